@@ -1,50527 +1,110 @@
-    if revdb_denotes r v then want_commit r v t a
-    else match (norm_base r (fst v), snd v) with
-         | (BBranch b, []) =>                         (* dirty branch: `db/branch` is the branch's working set *)
-           match branch_working r b with
-           | Some w => match assoc t (d_schema w) with
-                       | Some cols => ans_eqb a (ARows cols (rows_of t (d_data w)))
-                       | None => is_error a
-                       end
-           | None => is_error a
-           end
-         | _ => match a with ARows _ _ | AHist _ _ => want_commit r v t a | _ => true end   (* refusing is fine; rows must be the right ones *)
-         end
-(    if revdb_denotes r v then want_commit r v t a
-    else match (norm_base r (fst v), snd v) with
-         | (BBranch b, []) =>                         (* dirty branch: `db/branch` is the branch's working set *)
-           match branch_working r b with
-           | Some w => match assoc t (d_schema w) with
-                       | Some cols => ans_eqb a (ARows cols (rows_of t (d_data w)))
-                       | None => is_error a
-                       end
-           | None => is_error a
-           end
-         | _ => match a with ARows _ _ | AHist _ _ => want_commit r v t a | _ => true end   (* refusing is fine; rows must be the right ones *)
-         end
-*    if revdb_denotes r v then want_commit r v t a
-    else match (norm_base r (fst v), snd v) with
-         | (BBranch b, []) =>                         (* dirty branch: `db/branch` is the branch's working set *)
-           match branch_working r b with
-           | Some w => match assoc t (d_schema w) with
-                       | Some cols => ans_eqb a (ARows cols (rows_of t (d_data w)))
-                       | None => is_error a
-                       end
-           | None => is_error a
-           end
-         | _ => match a with ARows _ _ | AHist _ _ => want_commit r v t a | _ => true end   (* refusing is fine; rows must be the right ones *)
-         end
-     if revdb_denotes r v then want_commit r v t a
-    else match (norm_base r (fst v), snd v) with
-         | (BBranch b, []) =>                         (* dirty branch: `db/branch` is the branch's working set *)
-           match branch_working r b with
-           | Some w => match assoc t (d_schema w) with
-                       | Some cols => ans_eqb a (ARows cols (rows_of t (d_data w)))
-                       | None => is_error a
-                       end
-           | None => is_error a
-           end
-         | _ => match a with ARows _ _ | AHist _ _ => want_commit r v t a | _ => true end   (* refusing is fine; rows must be the right ones *)
-         end
-C    if revdb_denotes r v then want_commit r v t a
-    else match (norm_base r (fst v), snd v) with
-         | (BBranch b, []) =>                         (* dirty branch: `db/branch` is the branch's working set *)
-           match branch_working r b with
-           | Some w => match assoc t (d_schema w) with
-                       | Some cols => ans_eqb a (ARows cols (rows_of t (d_data w)))
-                       | None => is_error a
-                       end
-           | None => is_error a
-           end
-         | _ => match a with ARows _ _ | AHist _ _ => want_commit r v t a | _ => true end   (* refusing is fine; rows must be the right ones *)
-         end
-3    if revdb_denotes r v then want_commit r v t a
-    else match (norm_base r (fst v), snd v) with
-         | (BBranch b, []) =>                         (* dirty branch: `db/branch` is the branch's working set *)
-           match branch_working r b with
-           | Some w => match assoc t (d_schema w) with
-                       | Some cols => ans_eqb a (ARows cols (rows_of t (d_data w)))
-                       | None => is_error a
-                       end
-           | None => is_error a
-           end
-         | _ => match a with ARows _ _ | AHist _ _ => want_commit r v t a | _ => true end   (* refusing is fine; rows must be the right ones *)
-         end
-3    if revdb_denotes r v then want_commit r v t a
-    else match (norm_base r (fst v), snd v) with
-         | (BBranch b, []) =>                         (* dirty branch: `db/branch` is the branch's working set *)
-           match branch_working r b with
-           | Some w => match assoc t (d_schema w) with
-                       | Some cols => ans_eqb a (ARows cols (rows_of t (d_data w)))
-                       | None => is_error a
-                       end
-           | None => is_error a
-           end
-         | _ => match a with ARows _ _ | AHist _ _ => want_commit r v t a | _ => true end   (* refusing is fine; rows must be the right ones *)
-         end
-     if revdb_denotes r v then want_commit r v t a
-    else match (norm_base r (fst v), snd v) with
-         | (BBranch b, []) =>                         (* dirty branch: `db/branch` is the branch's working set *)
-           match branch_working r b with
-           | Some w => match assoc t (d_schema w) with
-                       | Some cols => ans_eqb a (ARows cols (rows_of t (d_data w)))
-                       | None => is_error a
-                       end
-           | None => is_error a
-           end
-         | _ => match a with ARows _ _ | AHist _ _ => want_commit r v t a | _ => true end   (* refusing is fine; rows must be the right ones *)
-         end
-—    if revdb_denotes r v then want_commit r v t a
-    else match (norm_base r (fst v), snd v) with
-         | (BBranch b, []) =>                         (* dirty branch: `db/branch` is the branch's working set *)
-           match branch_working r b with
-           | Some w => match assoc t (d_schema w) with
-                       | Some cols => ans_eqb a (ARows cols (rows_of t (d_data w)))
-                       | None => is_error a
-                       end
-           | None => is_error a
-           end
-         | _ => match a with ARows _ _ | AHist _ _ => want_commit r v t a | _ => true end   (* refusing is fine; rows must be the right ones *)
-         end
-     if revdb_denotes r v then want_commit r v t a
-    else match (norm_base r (fst v), snd v) with
-         | (BBranch b, []) =>                         (* dirty branch: `db/branch` is the branch's working set *)
-           match branch_working r b with
-           | Some w => match assoc t (d_schema w) with
-                       | Some cols => ans_eqb a (ARows cols (rows_of t (d_data w)))
-                       | None => is_error a
-                       end
-           | None => is_error a
-           end
-         | _ => match a with ARows _ _ | AHist _ _ => want_commit r v t a | _ => true end   (* refusing is fine; rows must be the right ones *)
-         end
-c    if revdb_denotes r v then want_commit r v t a
-    else match (norm_base r (fst v), snd v) with
-         | (BBranch b, []) =>                         (* dirty branch: `db/branch` is the branch's working set *)
-           match branch_working r b with
-           | Some w => match assoc t (d_schema w) with
-                       | Some cols => ans_eqb a (ARows cols (rows_of t (d_data w)))
-                       | None => is_error a
-                       end
-           | None => is_error a
-           end
-         | _ => match a with ARows _ _ | AHist _ _ => want_commit r v t a | _ => true end   (* refusing is fine; rows must be the right ones *)
-         end
-o    if revdb_denotes r v then want_commit r v t a
-    else match (norm_base r (fst v), snd v) with
-         | (BBranch b, []) =>                         (* dirty branch: `db/branch` is the branch's working set *)
-           match branch_working r b with
-           | Some w => match assoc t (d_schema w) with
-                       | Some cols => ans_eqb a (ARows cols (rows_of t (d_data w)))
-                       | None => is_error a
-                       end
-           | None => is_error a
-           end
-         | _ => match a with ARows _ _ | AHist _ _ => want_commit r v t a | _ => true end   (* refusing is fine; rows must be the right ones *)
-         end
-r    if revdb_denotes r v then want_commit r v t a
-    else match (norm_base r (fst v), snd v) with
-         | (BBranch b, []) =>                         (* dirty branch: `db/branch` is the branch's working set *)
-           match branch_working r b with
-           | Some w => match assoc t (d_schema w) with
-                       | Some cols => ans_eqb a (ARows cols (rows_of t (d_data w)))
-                       | None => is_error a
-                       end
-           | None => is_error a
-           end
-         | _ => match a with ARows _ _ | AHist _ _ => want_commit r v t a | _ => true end   (* refusing is fine; rows must be the right ones *)
-         end
-r    if revdb_denotes r v then want_commit r v t a
-    else match (norm_base r (fst v), snd v) with
-         | (BBranch b, []) =>                         (* dirty branch: `db/branch` is the branch's working set *)
-           match branch_working r b with
-           | Some w => match assoc t (d_schema w) with
-                       | Some cols => ans_eqb a (ARows cols (rows_of t (d_data w)))
-                       | None => is_error a
-                       end
-           | None => is_error a
-           end
-         | _ => match a with ARows _ _ | AHist _ _ => want_commit r v t a | _ => true end   (* refusing is fine; rows must be the right ones *)
-         end
-e    if revdb_denotes r v then want_commit r v t a
-    else match (norm_base r (fst v), snd v) with
-         | (BBranch b, []) =>                         (* dirty branch: `db/branch` is the branch's working set *)
-           match branch_working r b with
-           | Some w => match assoc t (d_schema w) with
-                       | Some cols => ans_eqb a (ARows cols (rows_of t (d_data w)))
-                       | None => is_error a
-                       end
-           | None => is_error a
-           end
-         | _ => match a with ARows _ _ | AHist _ _ => want_commit r v t a | _ => true end   (* refusing is fine; rows must be the right ones *)
-         end
-s    if revdb_denotes r v then want_commit r v t a
-    else match (norm_base r (fst v), snd v) with
-         | (BBranch b, []) =>                         (* dirty branch: `db/branch` is the branch's working set *)
-           match branch_working r b with
-           | Some w => match assoc t (d_schema w) with
-                       | Some cols => ans_eqb a (ARows cols (rows_of t (d_data w)))
-                       | None => is_error a
-                       end
-           | None => is_error a
-           end
-         | _ => match a with ARows _ _ | AHist _ _ => want_commit r v t a | _ => true end   (* refusing is fine; rows must be the right ones *)
-         end
-p    if revdb_denotes r v then want_commit r v t a
-    else match (norm_base r (fst v), snd v) with
-         | (BBranch b, []) =>                         (* dirty branch: `db/branch` is the branch's working set *)
-           match branch_working r b with
-           | Some w => match assoc t (d_schema w) with
-                       | Some cols => ans_eqb a (ARows cols (rows_of t (d_data w)))
-                       | None => is_error a
-                       end
-           | None => is_error a
-           end
-         | _ => match a with ARows _ _ | AHist _ _ => want_commit r v t a | _ => true end   (* refusing is fine; rows must be the right ones *)
-         end
-o    if revdb_denotes r v then want_commit r v t a
-    else match (norm_base r (fst v), snd v) with
-         | (BBranch b, []) =>                         (* dirty branch: `db/branch` is the branch's working set *)
-           match branch_working r b with
-           | Some w => match assoc t (d_schema w) with
-                       | Some cols => ans_eqb a (ARows cols (rows_of t (d_data w)))
-                       | None => is_error a
-                       end
-           | None => is_error a
-           end
-         | _ => match a with ARows _ _ | AHist _ _ => want_commit r v t a | _ => true end   (* refusing is fine; rows must be the right ones *)
-         end
-n    if revdb_denotes r v then want_commit r v t a
-    else match (norm_base r (fst v), snd v) with
-         | (BBranch b, []) =>                         (* dirty branch: `db/branch` is the branch's working set *)
-           match branch_working r b with
-           | Some w => match assoc t (d_schema w) with
-                       | Some cols => ans_eqb a (ARows cols (rows_of t (d_data w)))
-                       | None => is_error a
-                       end
-           | None => is_error a
-           end
-         | _ => match a with ARows _ _ | AHist _ _ => want_commit r v t a | _ => true end   (* refusing is fine; rows must be the right ones *)
-         end
-d    if revdb_denotes r v then want_commit r v t a
-    else match (norm_base r (fst v), snd v) with
-         | (BBranch b, []) =>                         (* dirty branch: `db/branch` is the branch's working set *)
-           match branch_working r b with
-           | Some w => match assoc t (d_schema w) with
-                       | Some cols => ans_eqb a (ARows cols (rows_of t (d_data w)))
-                       | None => is_error a
-                       end
-           | None => is_error a
-           end
-         | _ => match a with ARows _ _ | AHist _ _ => want_commit r v t a | _ => true end   (* refusing is fine; rows must be the right ones *)
-         end
-e    if revdb_denotes r v then want_commit r v t a
-    else match (norm_base r (fst v), snd v) with
-         | (BBranch b, []) =>                         (* dirty branch: `db/branch` is the branch's working set *)
-           match branch_working r b with
-           | Some w => match assoc t (d_schema w) with
-                       | Some cols => ans_eqb a (ARows cols (rows_of t (d_data w)))
-                       | None => is_error a
-                       end
-           | None => is_error a
-           end
-         | _ => match a with ARows _ _ | AHist _ _ => want_commit r v t a | _ => true end   (* refusing is fine; rows must be the right ones *)
-         end
-n    if revdb_denotes r v then want_commit r v t a
-    else match (norm_base r (fst v), snd v) with
-         | (BBranch b, []) =>                         (* dirty branch: `db/branch` is the branch's working set *)
-           match branch_working r b with
-           | Some w => match assoc t (d_schema w) with
-                       | Some cols => ans_eqb a (ARows cols (rows_of t (d_data w)))
-                       | None => is_error a
-                       end
-           | None => is_error a
-           end
-         | _ => match a with ARows _ _ | AHist _ _ => want_commit r v t a | _ => true end   (* refusing is fine; rows must be the right ones *)
-         end
-c    if revdb_denotes r v then want_commit r v t a
-    else match (norm_base r (fst v), snd v) with
-         | (BBranch b, []) =>                         (* dirty branch: `db/branch` is the branch's working set *)
-           match branch_working r b with
-           | Some w => match assoc t (d_schema w) with
-                       | Some cols => ans_eqb a (ARows cols (rows_of t (d_data w)))
-                       | None => is_error a
-                       end
-           | None => is_error a
-           end
-         | _ => match a with ARows _ _ | AHist _ _ => want_commit r v t a | _ => true end   (* refusing is fine; rows must be the right ones *)
-         end
-e    if revdb_denotes r v then want_commit r v t a
-    else match (norm_base r (fst v), snd v) with
-         | (BBranch b, []) =>                         (* dirty branch: `db/branch` is the branch's working set *)
-           match branch_working r b with
-           | Some w => match assoc t (d_schema w) with
-                       | Some cols => ans_eqb a (ARows cols (rows_of t (d_data w)))
-                       | None => is_error a
-                       end
-           | None => is_error a
-           end
-         | _ => match a with ARows _ _ | AHist _ _ => want_commit r v t a | _ => true end   (* refusing is fine; rows must be the right ones *)
-         end
-.    if revdb_denotes r v then want_commit r v t a
-    else match (norm_base r (fst v), snd v) with
-         | (BBranch b, []) =>                         (* dirty branch: `db/branch` is the branch's working set *)
-           match branch_working r b with
-           | Some w => match assoc t (d_schema w) with
-                       | Some cols => ans_eqb a (ARows cols (rows_of t (d_data w)))
-                       | None => is_error a
-                       end
-           | None => is_error a
-           end
-         | _ => match a with ARows _ _ | AHist _ _ => want_commit r v t a | _ => true end   (* refusing is fine; rows must be the right ones *)
-         end
-
-    if revdb_denotes r v then want_commit r v t a
-    else match (norm_base r (fst v), snd v) with
-         | (BBranch b, []) =>                         (* dirty branch: `db/branch` is the branch's working set *)
-           match branch_working r b with
-           | Some w => match assoc t (d_schema w) with
-                       | Some cols => ans_eqb a (ARows cols (rows_of t (d_data w)))
-                       | None => is_error a
-                       end
-           | None => is_error a
-           end
-         | _ => match a with ARows _ _ | AHist _ _ => want_commit r v t a | _ => true end   (* refusing is fine; rows must be the right ones *)
-         end
-     if revdb_denotes r v then want_commit r v t a
-    else match (norm_base r (fst v), snd v) with
-         | (BBranch b, []) =>                         (* dirty branch: `db/branch` is the branch's working set *)
-           match branch_working r b with
-           | Some w => match assoc t (d_schema w) with
-                       | Some cols => ans_eqb a (ARows cols (rows_of t (d_data w)))
-                       | None => is_error a
-                       end
-           | None => is_error a
-           end
-         | _ => match a with ARows _ _ | AHist _ _ => want_commit r v t a | _ => true end   (* refusing is fine; rows must be the right ones *)
-         end
-     if revdb_denotes r v then want_commit r v t a
-    else match (norm_base r (fst v), snd v) with
-         | (BBranch b, []) =>                         (* dirty branch: `db/branch` is the branch's working set *)
-           match branch_working r b with
-           | Some w => match assoc t (d_schema w) with
-                       | Some cols => ans_eqb a (ARows cols (rows_of t (d_data w)))
-                       | None => is_error a
-                       end
-           | None => is_error a
-           end
-         | _ => match a with ARows _ _ | AHist _ _ => want_commit r v t a | _ => true end   (* refusing is fine; rows must be the right ones *)
-         end
-     if revdb_denotes r v then want_commit r v t a
-    else match (norm_base r (fst v), snd v) with
-         | (BBranch b, []) =>                         (* dirty branch: `db/branch` is the branch's working set *)
-           match branch_working r b with
-           | Some w => match assoc t (d_schema w) with
-                       | Some cols => ans_eqb a (ARows cols (rows_of t (d_data w)))
-                       | None => is_error a
-                       end
-           | None => is_error a
-           end
-         | _ => match a with ARows _ _ | AHist _ _ => want_commit r v t a | _ => true end   (* refusing is fine; rows must be the right ones *)
-         end
-I    if revdb_denotes r v then want_commit r v t a
-    else match (norm_base r (fst v), snd v) with
-         | (BBranch b, []) =>                         (* dirty branch: `db/branch` is the branch's working set *)
-           match branch_working r b with
-           | Some w => match assoc t (d_schema w) with
-                       | Some cols => ans_eqb a (ARows cols (rows_of t (d_data w)))
-                       | None => is_error a
-                       end
-           | None => is_error a
-           end
-         | _ => match a with ARows _ _ | AHist _ _ => want_commit r v t a | _ => true end   (* refusing is fine; rows must be the right ones *)
-         end
-n    if revdb_denotes r v then want_commit r v t a
-    else match (norm_base r (fst v), snd v) with
-         | (BBranch b, []) =>                         (* dirty branch: `db/branch` is the branch's working set *)
-           match branch_working r b with
-           | Some w => match assoc t (d_schema w) with
-                       | Some cols => ans_eqb a (ARows cols (rows_of t (d_data w)))
-                       | None => is_error a
-                       end
-           | None => is_error a
-           end
-         | _ => match a with ARows _ _ | AHist _ _ => want_commit r v t a | _ => true end   (* refusing is fine; rows must be the right ones *)
-         end
-p    if revdb_denotes r v then want_commit r v t a
-    else match (norm_base r (fst v), snd v) with
-         | (BBranch b, []) =>                         (* dirty branch: `db/branch` is the branch's working set *)
-           match branch_working r b with
-           | Some w => match assoc t (d_schema w) with
-                       | Some cols => ans_eqb a (ARows cols (rows_of t (d_data w)))
-                       | None => is_error a
-                       end
-           | None => is_error a
-           end
-         | _ => match a with ARows _ _ | AHist _ _ => want_commit r v t a | _ => true end   (* refusing is fine; rows must be the right ones *)
-         end
-u    if revdb_denotes r v then want_commit r v t a
-    else match (norm_base r (fst v), snd v) with
-         | (BBranch b, []) =>                         (* dirty branch: `db/branch` is the branch's working set *)
-           match branch_working r b with
-           | Some w => match assoc t (d_schema w) with
-                       | Some cols => ans_eqb a (ARows cols (rows_of t (d_data w)))
-                       | None => is_error a
-                       end
-           | None => is_error a
-           end
-         | _ => match a with ARows _ _ | AHist _ _ => want_commit r v t a | _ => true end   (* refusing is fine; rows must be the right ones *)
-         end
-t    if revdb_denotes r v then want_commit r v t a
-    else match (norm_base r (fst v), snd v) with
-         | (BBranch b, []) =>                         (* dirty branch: `db/branch` is the branch's working set *)
-           match branch_working r b with
-           | Some w => match assoc t (d_schema w) with
-                       | Some cols => ans_eqb a (ARows cols (rows_of t (d_data w)))
-                       | None => is_error a
-                       end
-           | None => is_error a
-           end
-         | _ => match a with ARows _ _ | AHist _ _ => want_commit r v t a | _ => true end   (* refusing is fine; rows must be the right ones *)
-         end
-:    if revdb_denotes r v then want_commit r v t a
-    else match (norm_base r (fst v), snd v) with
-         | (BBranch b, []) =>                         (* dirty branch: `db/branch` is the branch's working set *)
-           match branch_working r b with
-           | Some w => match assoc t (d_schema w) with
-                       | Some cols => ans_eqb a (ARows cols (rows_of t (d_data w)))
-                       | None => is_error a
-                       end
-           | None => is_error a
-           end
-         | _ => match a with ARows _ _ | AHist _ _ => want_commit r v t a | _ => true end   (* refusing is fine; rows must be the right ones *)
-         end
-     if revdb_denotes r v then want_commit r v t a
-    else match (norm_base r (fst v), snd v) with
-         | (BBranch b, []) =>                         (* dirty branch: `db/branch` is the branch's working set *)
-           match branch_working r b with
-           | Some w => match assoc t (d_schema w) with
-                       | Some cols => ans_eqb a (ARows cols (rows_of t (d_data w)))
-                       | None => is_error a
-                       end
-           | None => is_error a
-           end
-         | _ => match a with ARows _ _ | AHist _ _ => want_commit r v t a | _ => true end   (* refusing is fine; rows must be the right ones *)
-         end
-t    if revdb_denotes r v then want_commit r v t a
-    else match (norm_base r (fst v), snd v) with
-         | (BBranch b, []) =>                         (* dirty branch: `db/branch` is the branch's working set *)
-           match branch_working r b with
-           | Some w => match assoc t (d_schema w) with
-                       | Some cols => ans_eqb a (ARows cols (rows_of t (d_data w)))
-                       | None => is_error a
-                       end
-           | None => is_error a
-           end
-         | _ => match a with ARows _ _ | AHist _ _ => want_commit r v t a | _ => true end   (* refusing is fine; rows must be the right ones *)
-         end
-h    if revdb_denotes r v then want_commit r v t a
-    else match (norm_base r (fst v), snd v) with
-         | (BBranch b, []) =>                         (* dirty branch: `db/branch` is the branch's working set *)
-           match branch_working r b with
-           | Some w => match assoc t (d_schema w) with
-                       | Some cols => ans_eqb a (ARows cols (rows_of t (d_data w)))
-                       | None => is_error a
-                       end
-           | None => is_error a
-           end
-         | _ => match a with ARows _ _ | AHist _ _ => want_commit r v t a | _ => true end   (* refusing is fine; rows must be the right ones *)
-         end
-e    if revdb_denotes r v then want_commit r v t a
-    else match (norm_base r (fst v), snd v) with
-         | (BBranch b, []) =>                         (* dirty branch: `db/branch` is the branch's working set *)
-           match branch_working r b with
-           | Some w => match assoc t (d_schema w) with
-                       | Some cols => ans_eqb a (ARows cols (rows_of t (d_data w)))
-                       | None => is_error a
-                       end
-           | None => is_error a
-           end
-         | _ => match a with ARows _ _ | AHist _ _ => want_commit r v t a | _ => true end   (* refusing is fine; rows must be the right ones *)
-         end
-     if revdb_denotes r v then want_commit r v t a
-    else match (norm_base r (fst v), snd v) with
-         | (BBranch b, []) =>                         (* dirty branch: `db/branch` is the branch's working set *)
-           match branch_working r b with
-           | Some w => match assoc t (d_schema w) with
-                       | Some cols => ans_eqb a (ARows cols (rows_of t (d_data w)))
-                       | None => is_error a
-                       end
-           | None => is_error a
-           end
-         | _ => match a with ARows _ _ | AHist _ _ => want_commit r v t a | _ => true end   (* refusing is fine; rows must be the right ones *)
-         end
-r    if revdb_denotes r v then want_commit r v t a
-    else match (norm_base r (fst v), snd v) with
-         | (BBranch b, []) =>                         (* dirty branch: `db/branch` is the branch's working set *)
-           match branch_working r b with
-           | Some w => match assoc t (d_schema w) with
-                       | Some cols => ans_eqb a (ARows cols (rows_of t (d_data w)))
-                       | None => is_error a
-                       end
-           | None => is_error a
-           end
-         | _ => match a with ARows _ _ | AHist _ _ => want_commit r v t a | _ => true end   (* refusing is fine; rows must be the right ones *)
-         end
-e    if revdb_denotes r v then want_commit r v t a
-    else match (norm_base r (fst v), snd v) with
-         | (BBranch b, []) =>                         (* dirty branch: `db/branch` is the branch's working set *)
-           match branch_working r b with
-           | Some w => match assoc t (d_schema w) with
-                       | Some cols => ans_eqb a (ARows cols (rows_of t (d_data w)))
-                       | None => is_error a
-                       end
-           | None => is_error a
-           end
-         | _ => match a with ARows _ _ | AHist _ _ => want_commit r v t a | _ => true end   (* refusing is fine; rows must be the right ones *)
-         end
-p    if revdb_denotes r v then want_commit r v t a
-    else match (norm_base r (fst v), snd v) with
-         | (BBranch b, []) =>                         (* dirty branch: `db/branch` is the branch's working set *)
-           match branch_working r b with
-           | Some w => match assoc t (d_schema w) with
-                       | Some cols => ans_eqb a (ARows cols (rows_of t (d_data w)))
-                       | None => is_error a
-                       end
-           | None => is_error a
-           end
-         | _ => match a with ARows _ _ | AHist _ _ => want_commit r v t a | _ => true end   (* refusing is fine; rows must be the right ones *)
-         end
-o    if revdb_denotes r v then want_commit r v t a
-    else match (norm_base r (fst v), snd v) with
-         | (BBranch b, []) =>                         (* dirty branch: `db/branch` is the branch's working set *)
-           match branch_working r b with
-           | Some w => match assoc t (d_schema w) with
-                       | Some cols => ans_eqb a (ARows cols (rows_of t (d_data w)))
-                       | None => is_error a
-                       end
-           | None => is_error a
-           end
-         | _ => match a with ARows _ _ | AHist _ _ => want_commit r v t a | _ => true end   (* refusing is fine; rows must be the right ones *)
-         end
-s    if revdb_denotes r v then want_commit r v t a
-    else match (norm_base r (fst v), snd v) with
-         | (BBranch b, []) =>                         (* dirty branch: `db/branch` is the branch's working set *)
-           match branch_working r b with
-           | Some w => match assoc t (d_schema w) with
-                       | Some cols => ans_eqb a (ARows cols (rows_of t (d_data w)))
-                       | None => is_error a
-                       end
-           | None => is_error a
-           end
-         | _ => match a with ARows _ _ | AHist _ _ => want_commit r v t a | _ => true end   (* refusing is fine; rows must be the right ones *)
-         end
-i    if revdb_denotes r v then want_commit r v t a
-    else match (norm_base r (fst v), snd v) with
-         | (BBranch b, []) =>                         (* dirty branch: `db/branch` is the branch's working set *)
-           match branch_working r b with
-           | Some w => match assoc t (d_schema w) with
-                       | Some cols => ans_eqb a (ARows cols (rows_of t (d_data w)))
-                       | None => is_error a
-                       end
-           | None => is_error a
-           end
-         | _ => match a with ARows _ _ | AHist _ _ => want_commit r v t a | _ => true end   (* refusing is fine; rows must be the right ones *)
-         end
-t    if revdb_denotes r v then want_commit r v t a
-    else match (norm_base r (fst v), snd v) with
-         | (BBranch b, []) =>                         (* dirty branch: `db/branch` is the branch's working set *)
-           match branch_working r b with
-           | Some w => match assoc t (d_schema w) with
-                       | Some cols => ans_eqb a (ARows cols (rows_of t (d_data w)))
-                       | None => is_error a
-                       end
-           | None => is_error a
-           end
-         | _ => match a with ARows _ _ | AHist _ _ => want_commit r v t a | _ => true end   (* refusing is fine; rows must be the right ones *)
-         end
-o    if revdb_denotes r v then want_commit r v t a
-    else match (norm_base r (fst v), snd v) with
-         | (BBranch b, []) =>                         (* dirty branch: `db/branch` is the branch's working set *)
-           match branch_working r b with
-           | Some w => match assoc t (d_schema w) with
-                       | Some cols => ans_eqb a (ARows cols (rows_of t (d_data w)))
-                       | None => is_error a
-                       end
-           | None => is_error a
-           end
-         | _ => match a with ARows _ _ | AHist _ _ => want_commit r v t a | _ => true end   (* refusing is fine; rows must be the right ones *)
-         end
-r    if revdb_denotes r v then want_commit r v t a
-    else match (norm_base r (fst v), snd v) with
-         | (BBranch b, []) =>                         (* dirty branch: `db/branch` is the branch's working set *)
-           match branch_working r b with
-           | Some w => match assoc t (d_schema w) with
-                       | Some cols => ans_eqb a (ARows cols (rows_of t (d_data w)))
-                       | None => is_error a
-                       end
-           | None => is_error a
-           end
-         | _ => match a with ARows _ _ | AHist _ _ => want_commit r v t a | _ => true end   (* refusing is fine; rows must be the right ones *)
-         end
-y    if revdb_denotes r v then want_commit r v t a
-    else match (norm_base r (fst v), snd v) with
-         | (BBranch b, []) =>                         (* dirty branch: `db/branch` is the branch's working set *)
-           match branch_working r b with
-           | Some w => match assoc t (d_schema w) with
-                       | Some cols => ans_eqb a (ARows cols (rows_of t (d_data w)))
-                       | None => is_error a
-                       end
-           | None => is_error a
-           end
-         | _ => match a with ARows _ _ | AHist _ _ => want_commit r v t a | _ => true end   (* refusing is fine; rows must be the right ones *)
-         end
-     if revdb_denotes r v then want_commit r v t a
-    else match (norm_base r (fst v), snd v) with
-         | (BBranch b, []) =>                         (* dirty branch: `db/branch` is the branch's working set *)
-           match branch_working r b with
-           | Some w => match assoc t (d_schema w) with
-                       | Some cols => ans_eqb a (ARows cols (rows_of t (d_data w)))
-                       | None => is_error a
-                       end
-           | None => is_error a
-           end
-         | _ => match a with ARows _ _ | AHist _ _ => want_commit r v t a | _ => true end   (* refusing is fine; rows must be the right ones *)
-         end
-a    if revdb_denotes r v then want_commit r v t a
-    else match (norm_base r (fst v), snd v) with
-         | (BBranch b, []) =>                         (* dirty branch: `db/branch` is the branch's working set *)
-           match branch_working r b with
-           | Some w => match assoc t (d_schema w) with
-                       | Some cols => ans_eqb a (ARows cols (rows_of t (d_data w)))
-                       | None => is_error a
-                       end
-           | None => is_error a
-           end
-         | _ => match a with ARows _ _ | AHist _ _ => want_commit r v t a | _ => true end   (* refusing is fine; rows must be the right ones *)
-         end
-s    if revdb_denotes r v then want_commit r v t a
-    else match (norm_base r (fst v), snd v) with
-         | (BBranch b, []) =>                         (* dirty branch: `db/branch` is the branch's working set *)
-           match branch_working r b with
-           | Some w => match assoc t (d_schema w) with
-                       | Some cols => ans_eqb a (ARows cols (rows_of t (d_data w)))
-                       | None => is_error a
-                       end
-           | None => is_error a
-           end
-         | _ => match a with ARows _ _ | AHist _ _ => want_commit r v t a | _ => true end   (* refusing is fine; rows must be the right ones *)
-         end
-     if revdb_denotes r v then want_commit r v t a
-    else match (norm_base r (fst v), snd v) with
-         | (BBranch b, []) =>                         (* dirty branch: `db/branch` is the branch's working set *)
-           match branch_working r b with
-           | Some w => match assoc t (d_schema w) with
-                       | Some cols => ans_eqb a (ARows cols (rows_of t (d_data w)))
-                       | None => is_error a
-                       end
-           | None => is_error a
-           end
-         | _ => match a with ARows _ _ | AHist _ _ => want_commit r v t a | _ => true end   (* refusing is fine; rows must be the right ones *)
-         end
-t    if revdb_denotes r v then want_commit r v t a
-    else match (norm_base r (fst v), snd v) with
-         | (BBranch b, []) =>                         (* dirty branch: `db/branch` is the branch's working set *)
-           match branch_working r b with
-           | Some w => match assoc t (d_schema w) with
-                       | Some cols => ans_eqb a (ARows cols (rows_of t (d_data w)))
-                       | None => is_error a
-                       end
-           | None => is_error a
-           end
-         | _ => match a with ARows _ _ | AHist _ _ => want_commit r v t a | _ => true end   (* refusing is fine; rows must be the right ones *)
-         end
-h    if revdb_denotes r v then want_commit r v t a
-    else match (norm_base r (fst v), snd v) with
-         | (BBranch b, []) =>                         (* dirty branch: `db/branch` is the branch's working set *)
-           match branch_working r b with
-           | Some w => match assoc t (d_schema w) with
-                       | Some cols => ans_eqb a (ARows cols (rows_of t (d_data w)))
-                       | None => is_error a
-                       end
-           | None => is_error a
-           end
-         | _ => match a with ARows _ _ | AHist _ _ => want_commit r v t a | _ => true end   (* refusing is fine; rows must be the right ones *)
-         end
-e    if revdb_denotes r v then want_commit r v t a
-    else match (norm_base r (fst v), snd v) with
-         | (BBranch b, []) =>                         (* dirty branch: `db/branch` is the branch's working set *)
-           match branch_working r b with
-           | Some w => match assoc t (d_schema w) with
-                       | Some cols => ans_eqb a (ARows cols (rows_of t (d_data w)))
-                       | None => is_error a
-                       end
-           | None => is_error a
-           end
-         | _ => match a with ARows _ _ | AHist _ _ => want_commit r v t a | _ => true end   (* refusing is fine; rows must be the right ones *)
-         end
-     if revdb_denotes r v then want_commit r v t a
-    else match (norm_base r (fst v), snd v) with
-         | (BBranch b, []) =>                         (* dirty branch: `db/branch` is the branch's working set *)
-           match branch_working r b with
-           | Some w => match assoc t (d_schema w) with
-                       | Some cols => ans_eqb a (ARows cols (rows_of t (d_data w)))
-                       | None => is_error a
-                       end
-           | None => is_error a
-           end
-         | _ => match a with ARows _ _ | AHist _ _ => want_commit r v t a | _ => true end   (* refusing is fine; rows must be the right ones *)
-         end
-h    if revdb_denotes r v then want_commit r v t a
-    else match (norm_base r (fst v), snd v) with
-         | (BBranch b, []) =>                         (* dirty branch: `db/branch` is the branch's working set *)
-           match branch_working r b with
-           | Some w => match assoc t (d_schema w) with
-                       | Some cols => ans_eqb a (ARows cols (rows_of t (d_data w)))
-                       | None => is_error a
-                       end
-           | None => is_error a
-           end
-         | _ => match a with ARows _ _ | AHist _ _ => want_commit r v t a | _ => true end   (* refusing is fine; rows must be the right ones *)
-         end
-a    if revdb_denotes r v then want_commit r v t a
-    else match (norm_base r (fst v), snd v) with
-         | (BBranch b, []) =>                         (* dirty branch: `db/branch` is the branch's working set *)
-           match branch_working r b with
-           | Some w => match assoc t (d_schema w) with
-                       | Some cols => ans_eqb a (ARows cols (rows_of t (d_data w)))
-                       | None => is_error a
-                       end
-           | None => is_error a
-           end
-         | _ => match a with ARows _ _ | AHist _ _ => want_commit r v t a | _ => true end   (* refusing is fine; rows must be the right ones *)
-         end
-r    if revdb_denotes r v then want_commit r v t a
-    else match (norm_base r (fst v), snd v) with
-         | (BBranch b, []) =>                         (* dirty branch: `db/branch` is the branch's working set *)
-           match branch_working r b with
-           | Some w => match assoc t (d_schema w) with
-                       | Some cols => ans_eqb a (ARows cols (rows_of t (d_data w)))
-                       | None => is_error a
-                       end
-           | None => is_error a
-           end
-         | _ => match a with ARows _ _ | AHist _ _ => want_commit r v t a | _ => true end   (* refusing is fine; rows must be the right ones *)
-         end
-n    if revdb_denotes r v then want_commit r v t a
-    else match (norm_base r (fst v), snd v) with
-         | (BBranch b, []) =>                         (* dirty branch: `db/branch` is the branch's working set *)
-           match branch_working r b with
-           | Some w => match assoc t (d_schema w) with
-                       | Some cols => ans_eqb a (ARows cols (rows_of t (d_data w)))
-                       | None => is_error a
-                       end
-           | None => is_error a
-           end
-         | _ => match a with ARows _ _ | AHist _ _ => want_commit r v t a | _ => true end   (* refusing is fine; rows must be the right ones *)
-         end
-e    if revdb_denotes r v then want_commit r v t a
-    else match (norm_base r (fst v), snd v) with
-         | (BBranch b, []) =>                         (* dirty branch: `db/branch` is the branch's working set *)
-           match branch_working r b with
-           | Some w => match assoc t (d_schema w) with
-                       | Some cols => ans_eqb a (ARows cols (rows_of t (d_data w)))
-                       | None => is_error a
-                       end
-           | None => is_error a
-           end
-         | _ => match a with ARows _ _ | AHist _ _ => want_commit r v t a | _ => true end   (* refusing is fine; rows must be the right ones *)
-         end
-s    if revdb_denotes r v then want_commit r v t a
-    else match (norm_base r (fst v), snd v) with
-         | (BBranch b, []) =>                         (* dirty branch: `db/branch` is the branch's working set *)
-           match branch_working r b with
-           | Some w => match assoc t (d_schema w) with
-                       | Some cols => ans_eqb a (ARows cols (rows_of t (d_data w)))
-                       | None => is_error a
-                       end
-           | None => is_error a
-           end
-         | _ => match a with ARows _ _ | AHist _ _ => want_commit r v t a | _ => true end   (* refusing is fine; rows must be the right ones *)
-         end
-s    if revdb_denotes r v then want_commit r v t a
-    else match (norm_base r (fst v), snd v) with
-         | (BBranch b, []) =>                         (* dirty branch: `db/branch` is the branch's working set *)
-           match branch_working r b with
-           | Some w => match assoc t (d_schema w) with
-                       | Some cols => ans_eqb a (ARows cols (rows_of t (d_data w)))
-                       | None => is_error a
-                       end
-           | None => is_error a
-           end
-         | _ => match a with ARows _ _ | AHist _ _ => want_commit r v t a | _ => true end   (* refusing is fine; rows must be the right ones *)
-         end
-     if revdb_denotes r v then want_commit r v t a
-    else match (norm_base r (fst v), snd v) with
-         | (BBranch b, []) =>                         (* dirty branch: `db/branch` is the branch's working set *)
-           match branch_working r b with
-           | Some w => match assoc t (d_schema w) with
-                       | Some cols => ans_eqb a (ARows cols (rows_of t (d_data w)))
-                       | None => is_error a
-                       end
-           | None => is_error a
-           end
-         | _ => match a with ARows _ _ | AHist _ _ => want_commit r v t a | _ => true end   (* refusing is fine; rows must be the right ones *)
-         end
-R    if revdb_denotes r v then want_commit r v t a
-    else match (norm_base r (fst v), snd v) with
-         | (BBranch b, []) =>                         (* dirty branch: `db/branch` is the branch's working set *)
-           match branch_working r b with
-           | Some w => match assoc t (d_schema w) with
-                       | Some cols => ans_eqb a (ARows cols (rows_of t (d_data w)))
-                       | None => is_error a
-                       end
-           | None => is_error a
-           end
-         | _ => match a with ARows _ _ | AHist _ _ => want_commit r v t a | _ => true end   (* refusing is fine; rows must be the right ones *)
-         end
-E    if revdb_denotes r v then want_commit r v t a
-    else match (norm_base r (fst v), snd v) with
-         | (BBranch b, []) =>                         (* dirty branch: `db/branch` is the branch's working set *)
-           match branch_working r b with
-           | Some w => match assoc t (d_schema w) with
-                       | Some cols => ans_eqb a (ARows cols (rows_of t (d_data w)))
-                       | None => is_error a
-                       end
-           | None => is_error a
-           end
-         | _ => match a with ARows _ _ | AHist _ _ => want_commit r v t a | _ => true end   (* refusing is fine; rows must be the right ones *)
-         end
-C    if revdb_denotes r v then want_commit r v t a
-    else match (norm_base r (fst v), snd v) with
-         | (BBranch b, []) =>                         (* dirty branch: `db/branch` is the branch's working set *)
-           match branch_working r b with
-           | Some w => match assoc t (d_schema w) with
-                       | Some cols => ans_eqb a (ARows cols (rows_of t (d_data w)))
-                       | None => is_error a
-                       end
-           | None => is_error a
-           end
-         | _ => match a with ARows _ _ | AHist _ _ => want_commit r v t a | _ => true end   (* refusing is fine; rows must be the right ones *)
-         end
-O    if revdb_denotes r v then want_commit r v t a
-    else match (norm_base r (fst v), snd v) with
-         | (BBranch b, []) =>                         (* dirty branch: `db/branch` is the branch's working set *)
-           match branch_working r b with
-           | Some w => match assoc t (d_schema w) with
-                       | Some cols => ans_eqb a (ARows cols (rows_of t (d_data w)))
-                       | None => is_error a
-                       end
-           | None => is_error a
-           end
-         | _ => match a with ARows _ _ | AHist _ _ => want_commit r v t a | _ => true end   (* refusing is fine; rows must be the right ones *)
-         end
-R    if revdb_denotes r v then want_commit r v t a
-    else match (norm_base r (fst v), snd v) with
-         | (BBranch b, []) =>                         (* dirty branch: `db/branch` is the branch's working set *)
-           match branch_working r b with
-           | Some w => match assoc t (d_schema w) with
-                       | Some cols => ans_eqb a (ARows cols (rows_of t (d_data w)))
-                       | None => is_error a
-                       end
-           | None => is_error a
-           end
-         | _ => match a with ARows _ _ | AHist _ _ => want_commit r v t a | _ => true end   (* refusing is fine; rows must be the right ones *)
-         end
-D    if revdb_denotes r v then want_commit r v t a
-    else match (norm_base r (fst v), snd v) with
-         | (BBranch b, []) =>                         (* dirty branch: `db/branch` is the branch's working set *)
-           match branch_working r b with
-           | Some w => match assoc t (d_schema w) with
-                       | Some cols => ans_eqb a (ARows cols (rows_of t (d_data w)))
-                       | None => is_error a
-                       end
-           | None => is_error a
-           end
-         | _ => match a with ARows _ _ | AHist _ _ => want_commit r v t a | _ => true end   (* refusing is fine; rows must be the right ones *)
-         end
-E    if revdb_denotes r v then want_commit r v t a
-    else match (norm_base r (fst v), snd v) with
-         | (BBranch b, []) =>                         (* dirty branch: `db/branch` is the branch's working set *)
-           match branch_working r b with
-           | Some w => match assoc t (d_schema w) with
-                       | Some cols => ans_eqb a (ARows cols (rows_of t (d_data w)))
-                       | None => is_error a
-                       end
-           | None => is_error a
-           end
-         | _ => match a with ARows _ _ | AHist _ _ => want_commit r v t a | _ => true end   (* refusing is fine; rows must be the right ones *)
-         end
-D    if revdb_denotes r v then want_commit r v t a
-    else match (norm_base r (fst v), snd v) with
-         | (BBranch b, []) =>                         (* dirty branch: `db/branch` is the branch's working set *)
-           match branch_working r b with
-           | Some w => match assoc t (d_schema w) with
-                       | Some cols => ans_eqb a (ARows cols (rows_of t (d_data w)))
-                       | None => is_error a
-                       end
-           | None => is_error a
-           end
-         | _ => match a with ARows _ _ | AHist _ _ => want_commit r v t a | _ => true end   (* refusing is fine; rows must be the right ones *)
-         end
-     if revdb_denotes r v then want_commit r v t a
-    else match (norm_base r (fst v), snd v) with
-         | (BBranch b, []) =>                         (* dirty branch: `db/branch` is the branch's working set *)
-           match branch_working r b with
-           | Some w => match assoc t (d_schema w) with
-                       | Some cols => ans_eqb a (ARows cols (rows_of t (d_data w)))
-                       | None => is_error a
-                       end
-           | None => is_error a
-           end
-         | _ => match a with ARows _ _ | AHist _ _ => want_commit r v t a | _ => true end   (* refusing is fine; rows must be the right ones *)
-         end
-i    if revdb_denotes r v then want_commit r v t a
-    else match (norm_base r (fst v), snd v) with
-         | (BBranch b, []) =>                         (* dirty branch: `db/branch` is the branch's working set *)
-           match branch_working r b with
-           | Some w => match assoc t (d_schema w) with
-                       | Some cols => ans_eqb a (ARows cols (rows_of t (d_data w)))
-                       | None => is_error a
-                       end
-           | None => is_error a
-           end
-         | _ => match a with ARows _ _ | AHist _ _ => want_commit r v t a | _ => true end   (* refusing is fine; rows must be the right ones *)
-         end
-t    if revdb_denotes r v then want_commit r v t a
-    else match (norm_base r (fst v), snd v) with
-         | (BBranch b, []) =>                         (* dirty branch: `db/branch` is the branch's working set *)
-           match branch_working r b with
-           | Some w => match assoc t (d_schema w) with
-                       | Some cols => ans_eqb a (ARows cols (rows_of t (d_data w)))
-                       | None => is_error a
-                       end
-           | None => is_error a
-           end
-         | _ => match a with ARows _ _ | AHist _ _ => want_commit r v t a | _ => true end   (* refusing is fine; rows must be the right ones *)
-         end
-     if revdb_denotes r v then want_commit r v t a
-    else match (norm_base r (fst v), snd v) with
-         | (BBranch b, []) =>                         (* dirty branch: `db/branch` is the branch's working set *)
-           match branch_working r b with
-           | Some w => match assoc t (d_schema w) with
-                       | Some cols => ans_eqb a (ARows cols (rows_of t (d_data w)))
-                       | None => is_error a
-                       end
-           | None => is_error a
-           end
-         | _ => match a with ARows _ _ | AHist _ _ => want_commit r v t a | _ => true end   (* refusing is fine; rows must be the right ones *)
-         end
-w    if revdb_denotes r v then want_commit r v t a
-    else match (norm_base r (fst v), snd v) with
-         | (BBranch b, []) =>                         (* dirty branch: `db/branch` is the branch's working set *)
-           match branch_working r b with
-           | Some w => match assoc t (d_schema w) with
-                       | Some cols => ans_eqb a (ARows cols (rows_of t (d_data w)))
-                       | None => is_error a
-                       end
-           | None => is_error a
-           end
-         | _ => match a with ARows _ _ | AHist _ _ => want_commit r v t a | _ => true end   (* refusing is fine; rows must be the right ones *)
-         end
-h    if revdb_denotes r v then want_commit r v t a
-    else match (norm_base r (fst v), snd v) with
-         | (BBranch b, []) =>                         (* dirty branch: `db/branch` is the branch's working set *)
-           match branch_working r b with
-           | Some w => match assoc t (d_schema w) with
-                       | Some cols => ans_eqb a (ARows cols (rows_of t (d_data w)))
-                       | None => is_error a
-                       end
-           | None => is_error a
-           end
-         | _ => match a with ARows _ _ | AHist _ _ => want_commit r v t a | _ => true end   (* refusing is fine; rows must be the right ones *)
-         end
-i    if revdb_denotes r v then want_commit r v t a
-    else match (norm_base r (fst v), snd v) with
-         | (BBranch b, []) =>                         (* dirty branch: `db/branch` is the branch's working set *)
-           match branch_working r b with
-           | Some w => match assoc t (d_schema w) with
-                       | Some cols => ans_eqb a (ARows cols (rows_of t (d_data w)))
-                       | None => is_error a
-                       end
-           | None => is_error a
-           end
-         | _ => match a with ARows _ _ | AHist _ _ => want_commit r v t a | _ => true end   (* refusing is fine; rows must be the right ones *)
-         end
-l    if revdb_denotes r v then want_commit r v t a
-    else match (norm_base r (fst v), snd v) with
-         | (BBranch b, []) =>                         (* dirty branch: `db/branch` is the branch's working set *)
-           match branch_working r b with
-           | Some w => match assoc t (d_schema w) with
-                       | Some cols => ans_eqb a (ARows cols (rows_of t (d_data w)))
-                       | None => is_error a
-                       end
-           | None => is_error a
-           end
-         | _ => match a with ARows _ _ | AHist _ _ => want_commit r v t a | _ => true end   (* refusing is fine; rows must be the right ones *)
-         end
-e    if revdb_denotes r v then want_commit r v t a
-    else match (norm_base r (fst v), snd v) with
-         | (BBranch b, []) =>                         (* dirty branch: `db/branch` is the branch's working set *)
-           match branch_working r b with
-           | Some w => match assoc t (d_schema w) with
-                       | Some cols => ans_eqb a (ARows cols (rows_of t (d_data w)))
-                       | None => is_error a
-                       end
-           | None => is_error a
-           end
-         | _ => match a with ARows _ _ | AHist _ _ => want_commit r v t a | _ => true end   (* refusing is fine; rows must be the right ones *)
-         end
-     if revdb_denotes r v then want_commit r v t a
-    else match (norm_base r (fst v), snd v) with
-         | (BBranch b, []) =>                         (* dirty branch: `db/branch` is the branch's working set *)
-           match branch_working r b with
-           | Some w => match assoc t (d_schema w) with
-                       | Some cols => ans_eqb a (ARows cols (rows_of t (d_data w)))
-                       | None => is_error a
-                       end
-           | None => is_error a
-           end
-         | _ => match a with ARows _ _ | AHist _ _ => want_commit r v t a | _ => true end   (* refusing is fine; rows must be the right ones *)
-         end
-t    if revdb_denotes r v then want_commit r v t a
-    else match (norm_base r (fst v), snd v) with
-         | (BBranch b, []) =>                         (* dirty branch: `db/branch` is the branch's working set *)
-           match branch_working r b with
-           | Some w => match assoc t (d_schema w) with
-                       | Some cols => ans_eqb a (ARows cols (rows_of t (d_data w)))
-                       | None => is_error a
-                       end
-           | None => is_error a
-           end
-         | _ => match a with ARows _ _ | AHist _ _ => want_commit r v t a | _ => true end   (* refusing is fine; rows must be the right ones *)
-         end
-h    if revdb_denotes r v then want_commit r v t a
-    else match (norm_base r (fst v), snd v) with
-         | (BBranch b, []) =>                         (* dirty branch: `db/branch` is the branch's working set *)
-           match branch_working r b with
-           | Some w => match assoc t (d_schema w) with
-                       | Some cols => ans_eqb a (ARows cols (rows_of t (d_data w)))
-                       | None => is_error a
-                       end
-           | None => is_error a
-           end
-         | _ => match a with ARows _ _ | AHist _ _ => want_commit r v t a | _ => true end   (* refusing is fine; rows must be the right ones *)
-         end
-e    if revdb_denotes r v then want_commit r v t a
-    else match (norm_base r (fst v), snd v) with
-         | (BBranch b, []) =>                         (* dirty branch: `db/branch` is the branch's working set *)
-           match branch_working r b with
-           | Some w => match assoc t (d_schema w) with
-                       | Some cols => ans_eqb a (ARows cols (rows_of t (d_data w)))
-                       | None => is_error a
-                       end
-           | None => is_error a
-           end
-         | _ => match a with ARows _ _ | AHist _ _ => want_commit r v t a | _ => true end   (* refusing is fine; rows must be the right ones *)
-         end
-     if revdb_denotes r v then want_commit r v t a
-    else match (norm_base r (fst v), snd v) with
-         | (BBranch b, []) =>                         (* dirty branch: `db/branch` is the branch's working set *)
-           match branch_working r b with
-           | Some w => match assoc t (d_schema w) with
-                       | Some cols => ans_eqb a (ARows cols (rows_of t (d_data w)))
-                       | None => is_error a
-                       end
-           | None => is_error a
-           end
-         | _ => match a with ARows _ _ | AHist _ _ => want_commit r v t a | _ => true end   (* refusing is fine; rows must be the right ones *)
-         end
-s    if revdb_denotes r v then want_commit r v t a
-    else match (norm_base r (fst v), snd v) with
-         | (BBranch b, []) =>                         (* dirty branch: `db/branch` is the branch's working set *)
-           match branch_working r b with
-           | Some w => match assoc t (d_schema w) with
-                       | Some cols => ans_eqb a (ARows cols (rows_of t (d_data w)))
-                       | None => is_error a
-                       end
-           | None => is_error a
-           end
-         | _ => match a with ARows _ _ | AHist _ _ => want_commit r v t a | _ => true end   (* refusing is fine; rows must be the right ones *)
-         end
-c    if revdb_denotes r v then want_commit r v t a
-    else match (norm_base r (fst v), snd v) with
-         | (BBranch b, []) =>                         (* dirty branch: `db/branch` is the branch's working set *)
-           match branch_working r b with
-           | Some w => match assoc t (d_schema w) with
-                       | Some cols => ans_eqb a (ARows cols (rows_of t (d_data w)))
-                       | None => is_error a
-                       end
-           | None => is_error a
-           end
-         | _ => match a with ARows _ _ | AHist _ _ => want_commit r v t a | _ => true end   (* refusing is fine; rows must be the right ones *)
-         end
-r    if revdb_denotes r v then want_commit r v t a
-    else match (norm_base r (fst v), snd v) with
-         | (BBranch b, []) =>                         (* dirty branch: `db/branch` is the branch's working set *)
-           match branch_working r b with
-           | Some w => match assoc t (d_schema w) with
-                       | Some cols => ans_eqb a (ARows cols (rows_of t (d_data w)))
-                       | None => is_error a
-                       end
-           | None => is_error a
-           end
-         | _ => match a with ARows _ _ | AHist _ _ => want_commit r v t a | _ => true end   (* refusing is fine; rows must be the right ones *)
-         end
-i    if revdb_denotes r v then want_commit r v t a
-    else match (norm_base r (fst v), snd v) with
-         | (BBranch b, []) =>                         (* dirty branch: `db/branch` is the branch's working set *)
-           match branch_working r b with
-           | Some w => match assoc t (d_schema w) with
-                       | Some cols => ans_eqb a (ARows cols (rows_of t (d_data w)))
-                       | None => is_error a
-                       end
-           | None => is_error a
-           end
-         | _ => match a with ARows _ _ | AHist _ _ => want_commit r v t a | _ => true end   (* refusing is fine; rows must be the right ones *)
-         end
-p    if revdb_denotes r v then want_commit r v t a
-    else match (norm_base r (fst v), snd v) with
-         | (BBranch b, []) =>                         (* dirty branch: `db/branch` is the branch's working set *)
-           match branch_working r b with
-           | Some w => match assoc t (d_schema w) with
-                       | Some cols => ans_eqb a (ARows cols (rows_of t (d_data w)))
-                       | None => is_error a
-                       end
-           | None => is_error a
-           end
-         | _ => match a with ARows _ _ | AHist _ _ => want_commit r v t a | _ => true end   (* refusing is fine; rows must be the right ones *)
-         end
-t    if revdb_denotes r v then want_commit r v t a
-    else match (norm_base r (fst v), snd v) with
-         | (BBranch b, []) =>                         (* dirty branch: `db/branch` is the branch's working set *)
-           match branch_working r b with
-           | Some w => match assoc t (d_schema w) with
-                       | Some cols => ans_eqb a (ARows cols (rows_of t (d_data w)))
-                       | None => is_error a
-                       end
-           | None => is_error a
-           end
-         | _ => match a with ARows _ _ | AHist _ _ => want_commit r v t a | _ => true end   (* refusing is fine; rows must be the right ones *)
-         end
-     if revdb_denotes r v then want_commit r v t a
-    else match (norm_base r (fst v), snd v) with
-         | (BBranch b, []) =>                         (* dirty branch: `db/branch` is the branch's working set *)
-           match branch_working r b with
-           | Some w => match assoc t (d_schema w) with
-                       | Some cols => ans_eqb a (ARows cols (rows_of t (d_data w)))
-                       | None => is_error a
-                       end
-           | None => is_error a
-           end
-         | _ => match a with ARows _ _ | AHist _ _ => want_commit r v t a | _ => true end   (* refusing is fine; rows must be the right ones *)
-         end
-r    if revdb_denotes r v then want_commit r v t a
-    else match (norm_base r (fst v), snd v) with
-         | (BBranch b, []) =>                         (* dirty branch: `db/branch` is the branch's working set *)
-           match branch_working r b with
-           | Some w => match assoc t (d_schema w) with
-                       | Some cols => ans_eqb a (ARows cols (rows_of t (d_data w)))
-                       | None => is_error a
-                       end
-           | None => is_error a
-           end
-         | _ => match a with ARows _ _ | AHist _ _ => want_commit r v t a | _ => true end   (* refusing is fine; rows must be the right ones *)
-         end
-a    if revdb_denotes r v then want_commit r v t a
-    else match (norm_base r (fst v), snd v) with
-         | (BBranch b, []) =>                         (* dirty branch: `db/branch` is the branch's working set *)
-           match branch_working r b with
-           | Some w => match assoc t (d_schema w) with
-                       | Some cols => ans_eqb a (ARows cols (rows_of t (d_data w)))
-                       | None => is_error a
-                       end
-           | None => is_error a
-           end
-         | _ => match a with ARows _ _ | AHist _ _ => want_commit r v t a | _ => true end   (* refusing is fine; rows must be the right ones *)
-         end
-n    if revdb_denotes r v then want_commit r v t a
-    else match (norm_base r (fst v), snd v) with
-         | (BBranch b, []) =>                         (* dirty branch: `db/branch` is the branch's working set *)
-           match branch_working r b with
-           | Some w => match assoc t (d_schema w) with
-                       | Some cols => ans_eqb a (ARows cols (rows_of t (d_data w)))
-                       | None => is_error a
-                       end
-           | None => is_error a
-           end
-         | _ => match a with ARows _ _ | AHist _ _ => want_commit r v t a | _ => true end   (* refusing is fine; rows must be the right ones *)
-         end
-     if revdb_denotes r v then want_commit r v t a
-    else match (norm_base r (fst v), snd v) with
-         | (BBranch b, []) =>                         (* dirty branch: `db/branch` is the branch's working set *)
-           match branch_working r b with
-           | Some w => match assoc t (d_schema w) with
-                       | Some cols => ans_eqb a (ARows cols (rows_of t (d_data w)))
-                       | None => is_error a
-                       end
-           | None => is_error a
-           end
-         | _ => match a with ARows _ _ | AHist _ _ => want_commit r v t a | _ => true end   (* refusing is fine; rows must be the right ones *)
-         end
-(    if revdb_denotes r v then want_commit r v t a
-    else match (norm_base r (fst v), snd v) with
-         | (BBranch b, []) =>                         (* dirty branch: `db/branch` is the branch's working set *)
-           match branch_working r b with
-           | Some w => match assoc t (d_schema w) with
-                       | Some cols => ans_eqb a (ARows cols (rows_of t (d_data w)))
-                       | None => is_error a
-                       end
-           | None => is_error a
-           end
-         | _ => match a with ARows _ _ | AHist _ _ => want_commit r v t a | _ => true end   (* refusing is fine; rows must be the right ones *)
-         end
-e    if revdb_denotes r v then want_commit r v t a
-    else match (norm_base r (fst v), snd v) with
-         | (BBranch b, []) =>                         (* dirty branch: `db/branch` is the branch's working set *)
-           match branch_working r b with
-           | Some w => match assoc t (d_schema w) with
-                       | Some cols => ans_eqb a (ARows cols (rows_of t (d_data w)))
-                       | None => is_error a
-                       end
-           | None => is_error a
-           end
-         | _ => match a with ARows _ _ | AHist _ _ => want_commit r v t a | _ => true end   (* refusing is fine; rows must be the right ones *)
-         end
-v    if revdb_denotes r v then want_commit r v t a
-    else match (norm_base r (fst v), snd v) with
-         | (BBranch b, []) =>                         (* dirty branch: `db/branch` is the branch's working set *)
-           match branch_working r b with
-           | Some w => match assoc t (d_schema w) with
-                       | Some cols => ans_eqb a (ARows cols (rows_of t (d_data w)))
-                       | None => is_error a
-                       end
-           | None => is_error a
-           end
-         | _ => match a with ARows _ _ | AHist _ _ => want_commit r v t a | _ => true end   (* refusing is fine; rows must be the right ones *)
-         end
-e    if revdb_denotes r v then want_commit r v t a
-    else match (norm_base r (fst v), snd v) with
-         | (BBranch b, []) =>                         (* dirty branch: `db/branch` is the branch's working set *)
-           match branch_working r b with
-           | Some w => match assoc t (d_schema w) with
-                       | Some cols => ans_eqb a (ARows cols (rows_of t (d_data w)))
-                       | None => is_error a
-                       end
-           | None => is_error a
-           end
-         | _ => match a with ARows _ _ | AHist _ _ => want_commit r v t a | _ => true end   (* refusing is fine; rows must be the right ones *)
-         end
-r    if revdb_denotes r v then want_commit r v t a
-    else match (norm_base r (fst v), snd v) with
-         | (BBranch b, []) =>                         (* dirty branch: `db/branch` is the branch's working set *)
-           match branch_working r b with
-           | Some w => match assoc t (d_schema w) with
-                       | Some cols => ans_eqb a (ARows cols (rows_of t (d_data w)))
-                       | None => is_error a
-                       end
-           | None => is_error a
-           end
-         | _ => match a with ARows _ _ | AHist _ _ => want_commit r v t a | _ => true end   (* refusing is fine; rows must be the right ones *)
-         end
-y    if revdb_denotes r v then want_commit r v t a
-    else match (norm_base r (fst v), snd v) with
-         | (BBranch b, []) =>                         (* dirty branch: `db/branch` is the branch's working set *)
-           match branch_working r b with
-           | Some w => match assoc t (d_schema w) with
-                       | Some cols => ans_eqb a (ARows cols (rows_of t (d_data w)))
-                       | None => is_error a
-                       end
-           | None => is_error a
-           end
-         | _ => match a with ARows _ _ | AHist _ _ => want_commit r v t a | _ => true end   (* refusing is fine; rows must be the right ones *)
-         end
-
-    if revdb_denotes r v then want_commit r v t a
-    else match (norm_base r (fst v), snd v) with
-         | (BBranch b, []) =>                         (* dirty branch: `db/branch` is the branch's working set *)
-           match branch_working r b with
-           | Some w => match assoc t (d_schema w) with
-                       | Some cols => ans_eqb a (ARows cols (rows_of t (d_data w)))
-                       | None => is_error a
-                       end
-           | None => is_error a
-           end
-         | _ => match a with ARows _ _ | AHist _ _ => want_commit r v t a | _ => true end   (* refusing is fine; rows must be the right ones *)
-         end
-     if revdb_denotes r v then want_commit r v t a
-    else match (norm_base r (fst v), snd v) with
-         | (BBranch b, []) =>                         (* dirty branch: `db/branch` is the branch's working set *)
-           match branch_working r b with
-           | Some w => match assoc t (d_schema w) with
-                       | Some cols => ans_eqb a (ARows cols (rows_of t (d_data w)))
-                       | None => is_error a
-                       end
-           | None => is_error a
-           end
-         | _ => match a with ARows _ _ | AHist _ _ => want_commit r v t a | _ => true end   (* refusing is fine; rows must be the right ones *)
-         end
-     if revdb_denotes r v then want_commit r v t a
-    else match (norm_base r (fst v), snd v) with
-         | (BBranch b, []) =>                         (* dirty branch: `db/branch` is the branch's working set *)
-           match branch_working r b with
-           | Some w => match assoc t (d_schema w) with
-                       | Some cols => ans_eqb a (ARows cols (rows_of t (d_data w)))
-                       | None => is_error a
-                       end
-           | None => is_error a
-           end
-         | _ => match a with ARows _ _ | AHist _ _ => want_commit r v t a | _ => true end   (* refusing is fine; rows must be the right ones *)
-         end
-     if revdb_denotes r v then want_commit r v t a
-    else match (norm_base r (fst v), snd v) with
-         | (BBranch b, []) =>                         (* dirty branch: `db/branch` is the branch's working set *)
-           match branch_working r b with
-           | Some w => match assoc t (d_schema w) with
-                       | Some cols => ans_eqb a (ARows cols (rows_of t (d_data w)))
-                       | None => is_error a
-                       end
-           | None => is_error a
-           end
-         | _ => match a with ARows _ _ | AHist _ _ => want_commit r v t a | _ => true end   (* refusing is fine; rows must be the right ones *)
-         end
-c    if revdb_denotes r v then want_commit r v t a
-    else match (norm_base r (fst v), snd v) with
-         | (BBranch b, []) =>                         (* dirty branch: `db/branch` is the branch's working set *)
-           match branch_working r b with
-           | Some w => match assoc t (d_schema w) with
-                       | Some cols => ans_eqb a (ARows cols (rows_of t (d_data w)))
-                       | None => is_error a
-                       end
-           | None => is_error a
-           end
-         | _ => match a with ARows _ _ | AHist _ _ => want_commit r v t a | _ => true end   (* refusing is fine; rows must be the right ones *)
-         end
-o    if revdb_denotes r v then want_commit r v t a
-    else match (norm_base r (fst v), snd v) with
-         | (BBranch b, []) =>                         (* dirty branch: `db/branch` is the branch's working set *)
-           match branch_working r b with
-           | Some w => match assoc t (d_schema w) with
-                       | Some cols => ans_eqb a (ARows cols (rows_of t (d_data w)))
-                       | None => is_error a
-                       end
-           | None => is_error a
-           end
-         | _ => match a with ARows _ _ | AHist _ _ => want_commit r v t a | _ => true end   (* refusing is fine; rows must be the right ones *)
-         end
-m    if revdb_denotes r v then want_commit r v t a
-    else match (norm_base r (fst v), snd v) with
-         | (BBranch b, []) =>                         (* dirty branch: `db/branch` is the branch's working set *)
-           match branch_working r b with
-           | Some w => match assoc t (d_schema w) with
-                       | Some cols => ans_eqb a (ARows cols (rows_of t (d_data w)))
-                       | None => is_error a
-                       end
-           | None => is_error a
-           end
-         | _ => match a with ARows _ _ | AHist _ _ => want_commit r v t a | _ => true end   (* refusing is fine; rows must be the right ones *)
-         end
-m    if revdb_denotes r v then want_commit r v t a
-    else match (norm_base r (fst v), snd v) with
-         | (BBranch b, []) =>                         (* dirty branch: `db/branch` is the branch's working set *)
-           match branch_working r b with
-           | Some w => match assoc t (d_schema w) with
-                       | Some cols => ans_eqb a (ARows cols (rows_of t (d_data w)))
-                       | None => is_error a
-                       end
-           | None => is_error a
-           end
-         | _ => match a with ARows _ _ | AHist _ _ => want_commit r v t a | _ => true end   (* refusing is fine; rows must be the right ones *)
-         end
-i    if revdb_denotes r v then want_commit r v t a
-    else match (norm_base r (fst v), snd v) with
-         | (BBranch b, []) =>                         (* dirty branch: `db/branch` is the branch's working set *)
-           match branch_working r b with
-           | Some w => match assoc t (d_schema w) with
-                       | Some cols => ans_eqb a (ARows cols (rows_of t (d_data w)))
-                       | None => is_error a
-                       end
-           | None => is_error a
-           end
-         | _ => match a with ARows _ _ | AHist _ _ => want_commit r v t a | _ => true end   (* refusing is fine; rows must be the right ones *)
-         end
-t    if revdb_denotes r v then want_commit r v t a
-    else match (norm_base r (fst v), snd v) with
-         | (BBranch b, []) =>                         (* dirty branch: `db/branch` is the branch's working set *)
-           match branch_working r b with
-           | Some w => match assoc t (d_schema w) with
-                       | Some cols => ans_eqb a (ARows cols (rows_of t (d_data w)))
-                       | None => is_error a
-                       end
-           | None => is_error a
-           end
-         | _ => match a with ARows _ _ | AHist _ _ => want_commit r v t a | _ => true end   (* refusing is fine; rows must be the right ones *)
-         end
-     if revdb_denotes r v then want_commit r v t a
-    else match (norm_base r (fst v), snd v) with
-         | (BBranch b, []) =>                         (* dirty branch: `db/branch` is the branch's working set *)
-           match branch_working r b with
-           | Some w => match assoc t (d_schema w) with
-                       | Some cols => ans_eqb a (ARows cols (rows_of t (d_data w)))
-                       | None => is_error a
-                       end
-           | None => is_error a
-           end
-         | _ => match a with ARows _ _ | AHist _ _ => want_commit r v t a | _ => true end   (* refusing is fine; rows must be the right ones *)
-         end
-w    if revdb_denotes r v then want_commit r v t a
-    else match (norm_base r (fst v), snd v) with
-         | (BBranch b, []) =>                         (* dirty branch: `db/branch` is the branch's working set *)
-           match branch_working r b with
-           | Some w => match assoc t (d_schema w) with
-                       | Some cols => ans_eqb a (ARows cols (rows_of t (d_data w)))
-                       | None => is_error a
-                       end
-           | None => is_error a
-           end
-         | _ => match a with ARows _ _ | AHist _ _ => want_commit r v t a | _ => true end   (* refusing is fine; rows must be the right ones *)
-         end
-i    if revdb_denotes r v then want_commit r v t a
-    else match (norm_base r (fst v), snd v) with
-         | (BBranch b, []) =>                         (* dirty branch: `db/branch` is the branch's working set *)
-           match branch_working r b with
-           | Some w => match assoc t (d_schema w) with
-                       | Some cols => ans_eqb a (ARows cols (rows_of t (d_data w)))
-                       | None => is_error a
-                       end
-           | None => is_error a
-           end
-         | _ => match a with ARows _ _ | AHist _ _ => want_commit r v t a | _ => true end   (* refusing is fine; rows must be the right ones *)
-         end
-t    if revdb_denotes r v then want_commit r v t a
-    else match (norm_base r (fst v), snd v) with
-         | (BBranch b, []) =>                         (* dirty branch: `db/branch` is the branch's working set *)
-           match branch_working r b with
-           | Some w => match assoc t (d_schema w) with
-                       | Some cols => ans_eqb a (ARows cols (rows_of t (d_data w)))
-                       | None => is_error a
-                       end
-           | None => is_error a
-           end
-         | _ => match a with ARows _ _ | AHist _ _ => want_commit r v t a | _ => true end   (* refusing is fine; rows must be the right ones *)
-         end
-h    if revdb_denotes r v then want_commit r v t a
-    else match (norm_base r (fst v), snd v) with
-         | (BBranch b, []) =>                         (* dirty branch: `db/branch` is the branch's working set *)
-           match branch_working r b with
-           | Some w => match assoc t (d_schema w) with
-                       | Some cols => ans_eqb a (ARows cols (rows_of t (d_data w)))
-                       | None => is_error a
-                       end
-           | None => is_error a
-           end
-         | _ => match a with ARows _ _ | AHist _ _ => want_commit r v t a | _ => true end   (* refusing is fine; rows must be the right ones *)
-         end
-     if revdb_denotes r v then want_commit r v t a
-    else match (norm_base r (fst v), snd v) with
-         | (BBranch b, []) =>                         (* dirty branch: `db/branch` is the branch's working set *)
-           match branch_working r b with
-           | Some w => match assoc t (d_schema w) with
-                       | Some cols => ans_eqb a (ARows cols (rows_of t (d_data w)))
-                       | None => is_error a
-                       end
-           | None => is_error a
-           end
-         | _ => match a with ARows _ _ | AHist _ _ => want_commit r v t a | _ => true end   (* refusing is fine; rows must be the right ones *)
-         end
-i    if revdb_denotes r v then want_commit r v t a
-    else match (norm_base r (fst v), snd v) with
-         | (BBranch b, []) =>                         (* dirty branch: `db/branch` is the branch's working set *)
-           match branch_working r b with
-           | Some w => match assoc t (d_schema w) with
-                       | Some cols => ans_eqb a (ARows cols (rows_of t (d_data w)))
-                       | None => is_error a
-                       end
-           | None => is_error a
-           end
-         | _ => match a with ARows _ _ | AHist _ _ => want_commit r v t a | _ => true end   (* refusing is fine; rows must be the right ones *)
-         end
-t    if revdb_denotes r v then want_commit r v t a
-    else match (norm_base r (fst v), snd v) with
-         | (BBranch b, []) =>                         (* dirty branch: `db/branch` is the branch's working set *)
-           match branch_working r b with
-           | Some w => match assoc t (d_schema w) with
-                       | Some cols => ans_eqb a (ARows cols (rows_of t (d_data w)))
-                       | None => is_error a
-                       end
-           | None => is_error a
-           end
-         | _ => match a with ARows _ _ | AHist _ _ => want_commit r v t a | _ => true end   (* refusing is fine; rows must be the right ones *)
-         end
-s    if revdb_denotes r v then want_commit r v t a
-    else match (norm_base r (fst v), snd v) with
-         | (BBranch b, []) =>                         (* dirty branch: `db/branch` is the branch's working set *)
-           match branch_working r b with
-           | Some w => match assoc t (d_schema w) with
-                       | Some cols => ans_eqb a (ARows cols (rows_of t (d_data w)))
-                       | None => is_error a
-                       end
-           | None => is_error a
-           end
-         | _ => match a with ARows _ _ | AHist _ _ => want_commit r v t a | _ => true end   (* refusing is fine; rows must be the right ones *)
-         end
-     if revdb_denotes r v then want_commit r v t a
-    else match (norm_base r (fst v), snd v) with
-         | (BBranch b, []) =>                         (* dirty branch: `db/branch` is the branch's working set *)
-           match branch_working r b with
-           | Some w => match assoc t (d_schema w) with
-                       | Some cols => ans_eqb a (ARows cols (rows_of t (d_data w)))
-                       | None => is_error a
-                       end
-           | None => is_error a
-           end
-         | _ => match a with ARows _ _ | AHist _ _ => want_commit r v t a | _ => true end   (* refusing is fine; rows must be the right ones *)
-         end
-p    if revdb_denotes r v then want_commit r v t a
-    else match (norm_base r (fst v), snd v) with
-         | (BBranch b, []) =>                         (* dirty branch: `db/branch` is the branch's working set *)
-           match branch_working r b with
-           | Some w => match assoc t (d_schema w) with
-                       | Some cols => ans_eqb a (ARows cols (rows_of t (d_data w)))
-                       | None => is_error a
-                       end
-           | None => is_error a
-           end
-         | _ => match a with ARows _ _ | AHist _ _ => want_commit r v t a | _ => true end   (* refusing is fine; rows must be the right ones *)
-         end
-a    if revdb_denotes r v then want_commit r v t a
-    else match (norm_base r (fst v), snd v) with
-         | (BBranch b, []) =>                         (* dirty branch: `db/branch` is the branch's working set *)
-           match branch_working r b with
-           | Some w => match assoc t (d_schema w) with
-                       | Some cols => ans_eqb a (ARows cols (rows_of t (d_data w)))
-                       | None => is_error a
-                       end
-           | None => is_error a
-           end
-         | _ => match a with ARows _ _ | AHist _ _ => want_commit r v t a | _ => true end   (* refusing is fine; rows must be the right ones *)
-         end
-r    if revdb_denotes r v then want_commit r v t a
-    else match (norm_base r (fst v), snd v) with
-         | (BBranch b, []) =>                         (* dirty branch: `db/branch` is the branch's working set *)
-           match branch_working r b with
-           | Some w => match assoc t (d_schema w) with
-                       | Some cols => ans_eqb a (ARows cols (rows_of t (d_data w)))
-                       | None => is_error a
-                       end
-           | None => is_error a
-           end
-         | _ => match a with ARows _ _ | AHist _ _ => want_commit r v t a | _ => true end   (* refusing is fine; rows must be the right ones *)
-         end
-e    if revdb_denotes r v then want_commit r v t a
-    else match (norm_base r (fst v), snd v) with
-         | (BBranch b, []) =>                         (* dirty branch: `db/branch` is the branch's working set *)
-           match branch_working r b with
-           | Some w => match assoc t (d_schema w) with
-                       | Some cols => ans_eqb a (ARows cols (rows_of t (d_data w)))
-                       | None => is_error a
-                       end
-           | None => is_error a
-           end
-         | _ => match a with ARows _ _ | AHist _ _ => want_commit r v t a | _ => true end   (* refusing is fine; rows must be the right ones *)
-         end
-n    if revdb_denotes r v then want_commit r v t a
-    else match (norm_base r (fst v), snd v) with
-         | (BBranch b, []) =>                         (* dirty branch: `db/branch` is the branch's working set *)
-           match branch_working r b with
-           | Some w => match assoc t (d_schema w) with
-                       | Some cols => ans_eqb a (ARows cols (rows_of t (d_data w)))
-                       | None => is_error a
-                       end
-           | None => is_error a
-           end
-         | _ => match a with ARows _ _ | AHist _ _ => want_commit r v t a | _ => true end   (* refusing is fine; rows must be the right ones *)
-         end
-t    if revdb_denotes r v then want_commit r v t a
-    else match (norm_base r (fst v), snd v) with
-         | (BBranch b, []) =>                         (* dirty branch: `db/branch` is the branch's working set *)
-           match branch_working r b with
-           | Some w => match assoc t (d_schema w) with
-                       | Some cols => ans_eqb a (ARows cols (rows_of t (d_data w)))
-                       | None => is_error a
-                       end
-           | None => is_error a
-           end
-         | _ => match a with ARows _ _ | AHist _ _ => want_commit r v t a | _ => true end   (* refusing is fine; rows must be the right ones *)
-         end
-s    if revdb_denotes r v then want_commit r v t a
-    else match (norm_base r (fst v), snd v) with
-         | (BBranch b, []) =>                         (* dirty branch: `db/branch` is the branch's working set *)
-           match branch_working r b with
-           | Some w => match assoc t (d_schema w) with
-                       | Some cols => ans_eqb a (ARows cols (rows_of t (d_data w)))
-                       | None => is_error a
-                       end
-           | None => is_error a
-           end
-         | _ => match a with ARows _ _ | AHist _ _ => want_commit r v t a | _ => true end   (* refusing is fine; rows must be the right ones *)
-         end
-     if revdb_denotes r v then want_commit r v t a
-    else match (norm_base r (fst v), snd v) with
-         | (BBranch b, []) =>                         (* dirty branch: `db/branch` is the branch's working set *)
-           match branch_working r b with
-           | Some w => match assoc t (d_schema w) with
-                       | Some cols => ans_eqb a (ARows cols (rows_of t (d_data w)))
-                       | None => is_error a
-                       end
-           | None => is_error a
-           end
-         | _ => match a with ARows _ _ | AHist _ _ => want_commit r v t a | _ => true end   (* refusing is fine; rows must be the right ones *)
-         end
-a    if revdb_denotes r v then want_commit r v t a
-    else match (norm_base r (fst v), snd v) with
-         | (BBranch b, []) =>                         (* dirty branch: `db/branch` is the branch's working set *)
-           match branch_working r b with
-           | Some w => match assoc t (d_schema w) with
-                       | Some cols => ans_eqb a (ARows cols (rows_of t (d_data w)))
-                       | None => is_error a
-                       end
-           | None => is_error a
-           end
-         | _ => match a with ARows _ _ | AHist _ _ => want_commit r v t a | _ => true end   (* refusing is fine; rows must be the right ones *)
-         end
-n    if revdb_denotes r v then want_commit r v t a
-    else match (norm_base r (fst v), snd v) with
-         | (BBranch b, []) =>                         (* dirty branch: `db/branch` is the branch's working set *)
-           match branch_working r b with
-           | Some w => match assoc t (d_schema w) with
-                       | Some cols => ans_eqb a (ARows cols (rows_of t (d_data w)))
-                       | None => is_error a
-                       end
-           | None => is_error a
-           end
-         | _ => match a with ARows _ _ | AHist _ _ => want_commit r v t a | _ => true end   (* refusing is fine; rows must be the right ones *)
-         end
-d    if revdb_denotes r v then want_commit r v t a
-    else match (norm_base r (fst v), snd v) with
-         | (BBranch b, []) =>                         (* dirty branch: `db/branch` is the branch's working set *)
-           match branch_working r b with
-           | Some w => match assoc t (d_schema w) with
-                       | Some cols => ans_eqb a (ARows cols (rows_of t (d_data w)))
-                       | None => is_error a
-                       end
-           | None => is_error a
-           end
-         | _ => match a with ARows _ _ | AHist _ _ => want_commit r v t a | _ => true end   (* refusing is fine; rows must be the right ones *)
-         end
-     if revdb_denotes r v then want_commit r v t a
-    else match (norm_base r (fst v), snd v) with
-         | (BBranch b, []) =>                         (* dirty branch: `db/branch` is the branch's working set *)
-           match branch_working r b with
-           | Some w => match assoc t (d_schema w) with
-                       | Some cols => ans_eqb a (ARows cols (rows_of t (d_data w)))
-                       | None => is_error a
-                       end
-           | None => is_error a
-           end
-         | _ => match a with ARows _ _ | AHist _ _ => want_commit r v t a | _ => true end   (* refusing is fine; rows must be the right ones *)
-         end
-t    if revdb_denotes r v then want_commit r v t a
-    else match (norm_base r (fst v), snd v) with
-         | (BBranch b, []) =>                         (* dirty branch: `db/branch` is the branch's working set *)
-           match branch_working r b with
-           | Some w => match assoc t (d_schema w) with
-                       | Some cols => ans_eqb a (ARows cols (rows_of t (d_data w)))
-                       | None => is_error a
-                       end
-           | None => is_error a
-           end
-         | _ => match a with ARows _ _ | AHist _ _ => want_commit r v t a | _ => true end   (* refusing is fine; rows must be the right ones *)
-         end
-h    if revdb_denotes r v then want_commit r v t a
-    else match (norm_base r (fst v), snd v) with
-         | (BBranch b, []) =>                         (* dirty branch: `db/branch` is the branch's working set *)
-           match branch_working r b with
-           | Some w => match assoc t (d_schema w) with
-                       | Some cols => ans_eqb a (ARows cols (rows_of t (d_data w)))
-                       | None => is_error a
-                       end
-           | None => is_error a
-           end
-         | _ => match a with ARows _ _ | AHist _ _ => want_commit r v t a | _ => true end   (* refusing is fine; rows must be the right ones *)
-         end
-e    if revdb_denotes r v then want_commit r v t a
-    else match (norm_base r (fst v), snd v) with
-         | (BBranch b, []) =>                         (* dirty branch: `db/branch` is the branch's working set *)
-           match branch_working r b with
-           | Some w => match assoc t (d_schema w) with
-                       | Some cols => ans_eqb a (ARows cols (rows_of t (d_data w)))
-                       | None => is_error a
-                       end
-           | None => is_error a
-           end
-         | _ => match a with ARows _ _ | AHist _ _ => want_commit r v t a | _ => true end   (* refusing is fine; rows must be the right ones *)
-         end
-     if revdb_denotes r v then want_commit r v t a
-    else match (norm_base r (fst v), snd v) with
-         | (BBranch b, []) =>                         (* dirty branch: `db/branch` is the branch's working set *)
-           match branch_working r b with
-           | Some w => match assoc t (d_schema w) with
-                       | Some cols => ans_eqb a (ARows cols (rows_of t (d_data w)))
-                       | None => is_error a
-                       end
-           | None => is_error a
-           end
-         | _ => match a with ARows _ _ | AHist _ _ => want_commit r v t a | _ => true end   (* refusing is fine; rows must be the right ones *)
-         end
-t    if revdb_denotes r v then want_commit r v t a
-    else match (norm_base r (fst v), snd v) with
-         | (BBranch b, []) =>                         (* dirty branch: `db/branch` is the branch's working set *)
-           match branch_working r b with
-           | Some w => match assoc t (d_schema w) with
-                       | Some cols => ans_eqb a (ARows cols (rows_of t (d_data w)))
-                       | None => is_error a
-                       end
-           | None => is_error a
-           end
-         | _ => match a with ARows _ _ | AHist _ _ => want_commit r v t a | _ => true end   (* refusing is fine; rows must be the right ones *)
-         end
-a    if revdb_denotes r v then want_commit r v t a
-    else match (norm_base r (fst v), snd v) with
-         | (BBranch b, []) =>                         (* dirty branch: `db/branch` is the branch's working set *)
-           match branch_working r b with
-           | Some w => match assoc t (d_schema w) with
-                       | Some cols => ans_eqb a (ARows cols (rows_of t (d_data w)))
-                       | None => is_error a
-                       end
-           | None => is_error a
-           end
-         | _ => match a with ARows _ _ | AHist _ _ => want_commit r v t a | _ => true end   (* refusing is fine; rows must be the right ones *)
-         end
-b    if revdb_denotes r v then want_commit r v t a
-    else match (norm_base r (fst v), snd v) with
-         | (BBranch b, []) =>                         (* dirty branch: `db/branch` is the branch's working set *)
-           match branch_working r b with
-           | Some w => match assoc t (d_schema w) with
-                       | Some cols => ans_eqb a (ARows cols (rows_of t (d_data w)))
-                       | None => is_error a
-                       end
-           | None => is_error a
-           end
-         | _ => match a with ARows _ _ | AHist _ _ => want_commit r v t a | _ => true end   (* refusing is fine; rows must be the right ones *)
-         end
-l    if revdb_denotes r v then want_commit r v t a
-    else match (norm_base r (fst v), snd v) with
-         | (BBranch b, []) =>                         (* dirty branch: `db/branch` is the branch's working set *)
-           match branch_working r b with
-           | Some w => match assoc t (d_schema w) with
-                       | Some cols => ans_eqb a (ARows cols (rows_of t (d_data w)))
-                       | None => is_error a
-                       end
-           | None => is_error a
-           end
-         | _ => match a with ARows _ _ | AHist _ _ => want_commit r v t a | _ => true end   (* refusing is fine; rows must be the right ones *)
-         end
-e    if revdb_denotes r v then want_commit r v t a
-    else match (norm_base r (fst v), snd v) with
-         | (BBranch b, []) =>                         (* dirty branch: `db/branch` is the branch's working set *)
-           match branch_working r b with
-           | Some w => match assoc t (d_schema w) with
-                       | Some cols => ans_eqb a (ARows cols (rows_of t (d_data w)))
-                       | None => is_error a
-                       end
-           | None => is_error a
-           end
-         | _ => match a with ARows _ _ | AHist _ _ => want_commit r v t a | _ => true end   (* refusing is fine; rows must be the right ones *)
-         end
-     if revdb_denotes r v then want_commit r v t a
-    else match (norm_base r (fst v), snd v) with
-         | (BBranch b, []) =>                         (* dirty branch: `db/branch` is the branch's working set *)
-           match branch_working r b with
-           | Some w => match assoc t (d_schema w) with
-                       | Some cols => ans_eqb a (ARows cols (rows_of t (d_data w)))
-                       | None => is_error a
-                       end
-           | None => is_error a
-           end
-         | _ => match a with ARows _ _ | AHist _ _ => want_commit r v t a | _ => true end   (* refusing is fine; rows must be the right ones *)
-         end
-c    if revdb_denotes r v then want_commit r v t a
-    else match (norm_base r (fst v), snd v) with
-         | (BBranch b, []) =>                         (* dirty branch: `db/branch` is the branch's working set *)
-           match branch_working r b with
-           | Some w => match assoc t (d_schema w) with
-                       | Some cols => ans_eqb a (ARows cols (rows_of t (d_data w)))
-                       | None => is_error a
-                       end
-           | None => is_error a
-           end
-         | _ => match a with ARows _ _ | AHist _ _ => want_commit r v t a | _ => true end   (* refusing is fine; rows must be the right ones *)
-         end
-o    if revdb_denotes r v then want_commit r v t a
-    else match (norm_base r (fst v), snd v) with
-         | (BBranch b, []) =>                         (* dirty branch: `db/branch` is the branch's working set *)
-           match branch_working r b with
-           | Some w => match assoc t (d_schema w) with
-                       | Some cols => ans_eqb a (ARows cols (rows_of t (d_data w)))
-                       | None => is_error a
-                       end
-           | None => is_error a
-           end
-         | _ => match a with ARows _ _ | AHist _ _ => want_commit r v t a | _ => true end   (* refusing is fine; rows must be the right ones *)
-         end
-n    if revdb_denotes r v then want_commit r v t a
-    else match (norm_base r (fst v), snd v) with
-         | (BBranch b, []) =>                         (* dirty branch: `db/branch` is the branch's working set *)
-           match branch_working r b with
-           | Some w => match assoc t (d_schema w) with
-                       | Some cols => ans_eqb a (ARows cols (rows_of t (d_data w)))
-                       | None => is_error a
-                       end
-           | None => is_error a
-           end
-         | _ => match a with ARows _ _ | AHist _ _ => want_commit r v t a | _ => true end   (* refusing is fine; rows must be the right ones *)
-         end
-t    if revdb_denotes r v then want_commit r v t a
-    else match (norm_base r (fst v), snd v) with
-         | (BBranch b, []) =>                         (* dirty branch: `db/branch` is the branch's working set *)
-           match branch_working r b with
-           | Some w => match assoc t (d_schema w) with
-                       | Some cols => ans_eqb a (ARows cols (rows_of t (d_data w)))
-                       | None => is_error a
-                       end
-           | None => is_error a
-           end
-         | _ => match a with ARows _ _ | AHist _ _ => want_commit r v t a | _ => true end   (* refusing is fine; rows must be the right ones *)
-         end
-e    if revdb_denotes r v then want_commit r v t a
-    else match (norm_base r (fst v), snd v) with
-         | (BBranch b, []) =>                         (* dirty branch: `db/branch` is the branch's working set *)
-           match branch_working r b with
-           | Some w => match assoc t (d_schema w) with
-                       | Some cols => ans_eqb a (ARows cols (rows_of t (d_data w)))
-                       | None => is_error a
-                       end
-           | None => is_error a
-           end
-         | _ => match a with ARows _ _ | AHist _ _ => want_commit r v t a | _ => true end   (* refusing is fine; rows must be the right ones *)
-         end
-n    if revdb_denotes r v then want_commit r v t a
-    else match (norm_base r (fst v), snd v) with
-         | (BBranch b, []) =>                         (* dirty branch: `db/branch` is the branch's working set *)
-           match branch_working r b with
-           | Some w => match assoc t (d_schema w) with
-                       | Some cols => ans_eqb a (ARows cols (rows_of t (d_data w)))
-                       | None => is_error a
-                       end
-           | None => is_error a
-           end
-         | _ => match a with ARows _ _ | AHist _ _ => want_commit r v t a | _ => true end   (* refusing is fine; rows must be the right ones *)
-         end
-t    if revdb_denotes r v then want_commit r v t a
-    else match (norm_base r (fst v), snd v) with
-         | (BBranch b, []) =>                         (* dirty branch: `db/branch` is the branch's working set *)
-           match branch_working r b with
-           | Some w => match assoc t (d_schema w) with
-                       | Some cols => ans_eqb a (ARows cols (rows_of t (d_data w)))
-                       | None => is_error a
-                       end
-           | None => is_error a
-           end
-         | _ => match a with ARows _ _ | AHist _ _ => want_commit r v t a | _ => true end   (* refusing is fine; rows must be the right ones *)
-         end
-s    if revdb_denotes r v then want_commit r v t a
-    else match (norm_base r (fst v), snd v) with
-         | (BBranch b, []) =>                         (* dirty branch: `db/branch` is the branch's working set *)
-           match branch_working r b with
-           | Some w => match assoc t (d_schema w) with
-                       | Some cols => ans_eqb a (ARows cols (rows_of t (d_data w)))
-                       | None => is_error a
-                       end
-           | None => is_error a
-           end
-         | _ => match a with ARows _ _ | AHist _ _ => want_commit r v t a | _ => true end   (* refusing is fine; rows must be the right ones *)
-         end
-     if revdb_denotes r v then want_commit r v t a
-    else match (norm_base r (fst v), snd v) with
-         | (BBranch b, []) =>                         (* dirty branch: `db/branch` is the branch's working set *)
-           match branch_working r b with
-           | Some w => match assoc t (d_schema w) with
-                       | Some cols => ans_eqb a (ARows cols (rows_of t (d_data w)))
-                       | None => is_error a
-                       end
-           | None => is_error a
-           end
-         | _ => match a with ARows _ _ | AHist _ _ => want_commit r v t a | _ => true end   (* refusing is fine; rows must be the right ones *)
-         end
-r    if revdb_denotes r v then want_commit r v t a
-    else match (norm_base r (fst v), snd v) with
-         | (BBranch b, []) =>                         (* dirty branch: `db/branch` is the branch's working set *)
-           match branch_working r b with
-           | Some w => match assoc t (d_schema w) with
-                       | Some cols => ans_eqb a (ARows cols (rows_of t (d_data w)))
-                       | None => is_error a
-                       end
-           | None => is_error a
-           end
-         | _ => match a with ARows _ _ | AHist _ _ => want_commit r v t a | _ => true end   (* refusing is fine; rows must be the right ones *)
-         end
-e    if revdb_denotes r v then want_commit r v t a
-    else match (norm_base r (fst v), snd v) with
-         | (BBranch b, []) =>                         (* dirty branch: `db/branch` is the branch's working set *)
-           match branch_working r b with
-           | Some w => match assoc t (d_schema w) with
-                       | Some cols => ans_eqb a (ARows cols (rows_of t (d_data w)))
-                       | None => is_error a
-                       end
-           | None => is_error a
-           end
-         | _ => match a with ARows _ _ | AHist _ _ => want_commit r v t a | _ => true end   (* refusing is fine; rows must be the right ones *)
-         end
-a    if revdb_denotes r v then want_commit r v t a
-    else match (norm_base r (fst v), snd v) with
-         | (BBranch b, []) =>                         (* dirty branch: `db/branch` is the branch's working set *)
-           match branch_working r b with
-           | Some w => match assoc t (d_schema w) with
-                       | Some cols => ans_eqb a (ARows cols (rows_of t (d_data w)))
-                       | None => is_error a
-                       end
-           | None => is_error a
-           end
-         | _ => match a with ARows _ _ | AHist _ _ => want_commit r v t a | _ => true end   (* refusing is fine; rows must be the right ones *)
-         end
-d    if revdb_denotes r v then want_commit r v t a
-    else match (norm_base r (fst v), snd v) with
-         | (BBranch b, []) =>                         (* dirty branch: `db/branch` is the branch's working set *)
-           match branch_working r b with
-           | Some w => match assoc t (d_schema w) with
-                       | Some cols => ans_eqb a (ARows cols (rows_of t (d_data w)))
-                       | None => is_error a
-                       end
-           | None => is_error a
-           end
-         | _ => match a with ARows _ _ | AHist _ _ => want_commit r v t a | _ => true end   (* refusing is fine; rows must be the right ones *)
-         end
-     if revdb_denotes r v then want_commit r v t a
-    else match (norm_base r (fst v), snd v) with
-         | (BBranch b, []) =>                         (* dirty branch: `db/branch` is the branch's working set *)
-           match branch_working r b with
-           | Some w => match assoc t (d_schema w) with
-                       | Some cols => ans_eqb a (ARows cols (rows_of t (d_data w)))
-                       | None => is_error a
-                       end
-           | None => is_error a
-           end
-         | _ => match a with ARows _ _ | AHist _ _ => want_commit r v t a | _ => true end   (* refusing is fine; rows must be the right ones *)
-         end
-a    if revdb_denotes r v then want_commit r v t a
-    else match (norm_base r (fst v), snd v) with
-         | (BBranch b, []) =>                         (* dirty branch: `db/branch` is the branch's working set *)
-           match branch_working r b with
-           | Some w => match assoc t (d_schema w) with
-                       | Some cols => ans_eqb a (ARows cols (rows_of t (d_data w)))
-                       | None => is_error a
-                       end
-           | None => is_error a
-           end
-         | _ => match a with ARows _ _ | AHist _ _ => want_commit r v t a | _ => true end   (* refusing is fine; rows must be the right ones *)
-         end
-t    if revdb_denotes r v then want_commit r v t a
-    else match (norm_base r (fst v), snd v) with
-         | (BBranch b, []) =>                         (* dirty branch: `db/branch` is the branch's working set *)
-           match branch_working r b with
-           | Some w => match assoc t (d_schema w) with
-                       | Some cols => ans_eqb a (ARows cols (rows_of t (d_data w)))
-                       | None => is_error a
-                       end
-           | None => is_error a
-           end
-         | _ => match a with ARows _ _ | AHist _ _ => want_commit r v t a | _ => true end   (* refusing is fine; rows must be the right ones *)
-         end
-     if revdb_denotes r v then want_commit r v t a
-    else match (norm_base r (fst v), snd v) with
-         | (BBranch b, []) =>                         (* dirty branch: `db/branch` is the branch's working set *)
-           match branch_working r b with
-           | Some w => match assoc t (d_schema w) with
-                       | Some cols => ans_eqb a (ARows cols (rows_of t (d_data w)))
-                       | None => is_error a
-                       end
-           | None => is_error a
-           end
-         | _ => match a with ARows _ _ | AHist _ _ => want_commit r v t a | _ => true end   (* refusing is fine; rows must be the right ones *)
-         end
-c    if revdb_denotes r v then want_commit r v t a
-    else match (norm_base r (fst v), snd v) with
-         | (BBranch b, []) =>                         (* dirty branch: `db/branch` is the branch's working set *)
-           match branch_working r b with
-           | Some w => match assoc t (d_schema w) with
-                       | Some cols => ans_eqb a (ARows cols (rows_of t (d_data w)))
-                       | None => is_error a
-                       end
-           | None => is_error a
-           end
-         | _ => match a with ARows _ _ | AHist _ _ => want_commit r v t a | _ => true end   (* refusing is fine; rows must be the right ones *)
-         end
-o    if revdb_denotes r v then want_commit r v t a
-    else match (norm_base r (fst v), snd v) with
-         | (BBranch b, []) =>                         (* dirty branch: `db/branch` is the branch's working set *)
-           match branch_working r b with
-           | Some w => match assoc t (d_schema w) with
-                       | Some cols => ans_eqb a (ARows cols (rows_of t (d_data w)))
-                       | None => is_error a
-                       end
-           | None => is_error a
-           end
-         | _ => match a with ARows _ _ | AHist _ _ => want_commit r v t a | _ => true end   (* refusing is fine; rows must be the right ones *)
-         end
-m    if revdb_denotes r v then want_commit r v t a
-    else match (norm_base r (fst v), snd v) with
-         | (BBranch b, []) =>                         (* dirty branch: `db/branch` is the branch's working set *)
-           match branch_working r b with
-           | Some w => match assoc t (d_schema w) with
-                       | Some cols => ans_eqb a (ARows cols (rows_of t (d_data w)))
-                       | None => is_error a
-                       end
-           | None => is_error a
-           end
-         | _ => match a with ARows _ _ | AHist _ _ => want_commit r v t a | _ => true end   (* refusing is fine; rows must be the right ones *)
-         end
-m    if revdb_denotes r v then want_commit r v t a
-    else match (norm_base r (fst v), snd v) with
-         | (BBranch b, []) =>                         (* dirty branch: `db/branch` is the branch's working set *)
-           match branch_working r b with
-           | Some w => match assoc t (d_schema w) with
-                       | Some cols => ans_eqb a (ARows cols (rows_of t (d_data w)))
-                       | None => is_error a
-                       end
-           | None => is_error a
-           end
-         | _ => match a with ARows _ _ | AHist _ _ => want_commit r v t a | _ => true end   (* refusing is fine; rows must be the right ones *)
-         end
-i    if revdb_denotes r v then want_commit r v t a
-    else match (norm_base r (fst v), snd v) with
-         | (BBranch b, []) =>                         (* dirty branch: `db/branch` is the branch's working set *)
-           match branch_working r b with
-           | Some w => match assoc t (d_schema w) with
-                       | Some cols => ans_eqb a (ARows cols (rows_of t (d_data w)))
-                       | None => is_error a
-                       end
-           | None => is_error a
-           end
-         | _ => match a with ARows _ _ | AHist _ _ => want_commit r v t a | _ => true end   (* refusing is fine; rows must be the right ones *)
-         end
-t    if revdb_denotes r v then want_commit r v t a
-    else match (norm_base r (fst v), snd v) with
-         | (BBranch b, []) =>                         (* dirty branch: `db/branch` is the branch's working set *)
-           match branch_working r b with
-           | Some w => match assoc t (d_schema w) with
-                       | Some cols => ans_eqb a (ARows cols (rows_of t (d_data w)))
-                       | None => is_error a
-                       end
-           | None => is_error a
-           end
-         | _ => match a with ARows _ _ | AHist _ _ => want_commit r v t a | _ => true end   (* refusing is fine; rows must be the right ones *)
-         end
-     if revdb_denotes r v then want_commit r v t a
-    else match (norm_base r (fst v), snd v) with
-         | (BBranch b, []) =>                         (* dirty branch: `db/branch` is the branch's working set *)
-           match branch_working r b with
-           | Some w => match assoc t (d_schema w) with
-                       | Some cols => ans_eqb a (ARows cols (rows_of t (d_data w)))
-                       | None => is_error a
-                       end
-           | None => is_error a
-           end
-         | _ => match a with ARows _ _ | AHist _ _ => want_commit r v t a | _ => true end   (* refusing is fine; rows must be the right ones *)
-         end
-t    if revdb_denotes r v then want_commit r v t a
-    else match (norm_base r (fst v), snd v) with
-         | (BBranch b, []) =>                         (* dirty branch: `db/branch` is the branch's working set *)
-           match branch_working r b with
-           | Some w => match assoc t (d_schema w) with
-                       | Some cols => ans_eqb a (ARows cols (rows_of t (d_data w)))
-                       | None => is_error a
-                       end
-           | None => is_error a
-           end
-         | _ => match a with ARows _ _ | AHist _ _ => want_commit r v t a | _ => true end   (* refusing is fine; rows must be the right ones *)
-         end
-i    if revdb_denotes r v then want_commit r v t a
-    else match (norm_base r (fst v), snd v) with
-         | (BBranch b, []) =>                         (* dirty branch: `db/branch` is the branch's working set *)
-           match branch_working r b with
-           | Some w => match assoc t (d_schema w) with
-                       | Some cols => ans_eqb a (ARows cols (rows_of t (d_data w)))
-                       | None => is_error a
-                       end
-           | None => is_error a
-           end
-         | _ => match a with ARows _ _ | AHist _ _ => want_commit r v t a | _ => true end   (* refusing is fine; rows must be the right ones *)
-         end
-m    if revdb_denotes r v then want_commit r v t a
-    else match (norm_base r (fst v), snd v) with
-         | (BBranch b, []) =>                         (* dirty branch: `db/branch` is the branch's working set *)
-           match branch_working r b with
-           | Some w => match assoc t (d_schema w) with
-                       | Some cols => ans_eqb a (ARows cols (rows_of t (d_data w)))
-                       | None => is_error a
-                       end
-           | None => is_error a
-           end
-         | _ => match a with ARows _ _ | AHist _ _ => want_commit r v t a | _ => true end   (* refusing is fine; rows must be the right ones *)
-         end
-e    if revdb_denotes r v then want_commit r v t a
-    else match (norm_base r (fst v), snd v) with
-         | (BBranch b, []) =>                         (* dirty branch: `db/branch` is the branch's working set *)
-           match branch_working r b with
-           | Some w => match assoc t (d_schema w) with
-                       | Some cols => ans_eqb a (ARows cols (rows_of t (d_data w)))
-                       | None => is_error a
-                       end
-           | None => is_error a
-           end
-         | _ => match a with ARows _ _ | AHist _ _ => want_commit r v t a | _ => true end   (* refusing is fine; rows must be the right ones *)
-         end
-,    if revdb_denotes r v then want_commit r v t a
-    else match (norm_base r (fst v), snd v) with
-         | (BBranch b, []) =>                         (* dirty branch: `db/branch` is the branch's working set *)
-           match branch_working r b with
-           | Some w => match assoc t (d_schema w) with
-                       | Some cols => ans_eqb a (ARows cols (rows_of t (d_data w)))
-                       | None => is_error a
-                       end
-           | None => is_error a
-           end
-         | _ => match a with ARows _ _ | AHist _ _ => want_commit r v t a | _ => true end   (* refusing is fine; rows must be the right ones *)
-         end
-     if revdb_denotes r v then want_commit r v t a
-    else match (norm_base r (fst v), snd v) with
-         | (BBranch b, []) =>                         (* dirty branch: `db/branch` is the branch's working set *)
-           match branch_working r b with
-           | Some w => match assoc t (d_schema w) with
-                       | Some cols => ans_eqb a (ARows cols (rows_of t (d_data w)))
-                       | None => is_error a
-                       end
-           | None => is_error a
-           end
-         | _ => match a with ARows _ _ | AHist _ _ => want_commit r v t a | _ => true end   (* refusing is fine; rows must be the right ones *)
-         end
-e    if revdb_denotes r v then want_commit r v t a
-    else match (norm_base r (fst v), snd v) with
-         | (BBranch b, []) =>                         (* dirty branch: `db/branch` is the branch's working set *)
-           match branch_working r b with
-           | Some w => match assoc t (d_schema w) with
-                       | Some cols => ans_eqb a (ARows cols (rows_of t (d_data w)))
-                       | None => is_error a
-                       end
-           | None => is_error a
-           end
-         | _ => match a with ARows _ _ | AHist _ _ => want_commit r v t a | _ => true end   (* refusing is fine; rows must be the right ones *)
-         end
-v    if revdb_denotes r v then want_commit r v t a
-    else match (norm_base r (fst v), snd v) with
-         | (BBranch b, []) =>                         (* dirty branch: `db/branch` is the branch's working set *)
-           match branch_working r b with
-           | Some w => match assoc t (d_schema w) with
-                       | Some cols => ans_eqb a (ARows cols (rows_of t (d_data w)))
-                       | None => is_error a
-                       end
-           | None => is_error a
-           end
-         | _ => match a with ARows _ _ | AHist _ _ => want_commit r v t a | _ => true end   (* refusing is fine; rows must be the right ones *)
-         end
-e    if revdb_denotes r v then want_commit r v t a
-    else match (norm_base r (fst v), snd v) with
-         | (BBranch b, []) =>                         (* dirty branch: `db/branch` is the branch's working set *)
-           match branch_working r b with
-           | Some w => match assoc t (d_schema w) with
-                       | Some cols => ans_eqb a (ARows cols (rows_of t (d_data w)))
-                       | None => is_error a
-                       end
-           | None => is_error a
-           end
-         | _ => match a with ARows _ _ | AHist _ _ => want_commit r v t a | _ => true end   (* refusing is fine; rows must be the right ones *)
-         end
-r    if revdb_denotes r v then want_commit r v t a
-    else match (norm_base r (fst v), snd v) with
-         | (BBranch b, []) =>                         (* dirty branch: `db/branch` is the branch's working set *)
-           match branch_working r b with
-           | Some w => match assoc t (d_schema w) with
-                       | Some cols => ans_eqb a (ARows cols (rows_of t (d_data w)))
-                       | None => is_error a
-                       end
-           | None => is_error a
-           end
-         | _ => match a with ARows _ _ | AHist _ _ => want_commit r v t a | _ => true end   (* refusing is fine; rows must be the right ones *)
-         end
-y    if revdb_denotes r v then want_commit r v t a
-    else match (norm_base r (fst v), snd v) with
-         | (BBranch b, []) =>                         (* dirty branch: `db/branch` is the branch's working set *)
-           match branch_working r b with
-           | Some w => match assoc t (d_schema w) with
-                       | Some cols => ans_eqb a (ARows cols (rows_of t (d_data w)))
-                       | None => is_error a
-                       end
-           | None => is_error a
-           end
-         | _ => match a with ARows _ _ | AHist _ _ => want_commit r v t a | _ => true end   (* refusing is fine; rows must be the right ones *)
-         end
-
-    if revdb_denotes r v then want_commit r v t a
-    else match (norm_base r (fst v), snd v) with
-         | (BBranch b, []) =>                         (* dirty branch: `db/branch` is the branch's working set *)
-           match branch_working r b with
-           | Some w => match assoc t (d_schema w) with
-                       | Some cols => ans_eqb a (ARows cols (rows_of t (d_data w)))
-                       | None => is_error a
-                       end
-           | None => is_error a
-           end
-         | _ => match a with ARows _ _ | AHist _ _ => want_commit r v t a | _ => true end   (* refusing is fine; rows must be the right ones *)
-         end
-     if revdb_denotes r v then want_commit r v t a
-    else match (norm_base r (fst v), snd v) with
-         | (BBranch b, []) =>                         (* dirty branch: `db/branch` is the branch's working set *)
-           match branch_working r b with
-           | Some w => match assoc t (d_schema w) with
-                       | Some cols => ans_eqb a (ARows cols (rows_of t (d_data w)))
-                       | None => is_error a
-                       end
-           | None => is_error a
-           end
-         | _ => match a with ARows _ _ | AHist _ _ => want_commit r v t a | _ => true end   (* refusing is fine; rows must be the right ones *)
-         end
-     if revdb_denotes r v then want_commit r v t a
-    else match (norm_base r (fst v), snd v) with
-         | (BBranch b, []) =>                         (* dirty branch: `db/branch` is the branch's working set *)
-           match branch_working r b with
-           | Some w => match assoc t (d_schema w) with
-                       | Some cols => ans_eqb a (ARows cols (rows_of t (d_data w)))
-                       | None => is_error a
-                       end
-           | None => is_error a
-           end
-         | _ => match a with ARows _ _ | AHist _ _ => want_commit r v t a | _ => true end   (* refusing is fine; rows must be the right ones *)
-         end
-     if revdb_denotes r v then want_commit r v t a
-    else match (norm_base r (fst v), snd v) with
-         | (BBranch b, []) =>                         (* dirty branch: `db/branch` is the branch's working set *)
-           match branch_working r b with
-           | Some w => match assoc t (d_schema w) with
-                       | Some cols => ans_eqb a (ARows cols (rows_of t (d_data w)))
-                       | None => is_error a
-                       end
-           | None => is_error a
-           end
-         | _ => match a with ARows _ _ | AHist _ _ => want_commit r v t a | _ => true end   (* refusing is fine; rows must be the right ones *)
-         end
-b    if revdb_denotes r v then want_commit r v t a
-    else match (norm_base r (fst v), snd v) with
-         | (BBranch b, []) =>                         (* dirty branch: `db/branch` is the branch's working set *)
-           match branch_working r b with
-           | Some w => match assoc t (d_schema w) with
-                       | Some cols => ans_eqb a (ARows cols (rows_of t (d_data w)))
-                       | None => is_error a
-                       end
-           | None => is_error a
-           end
-         | _ => match a with ARows _ _ | AHist _ _ => want_commit r v t a | _ => true end   (* refusing is fine; rows must be the right ones *)
-         end
-r    if revdb_denotes r v then want_commit r v t a
-    else match (norm_base r (fst v), snd v) with
-         | (BBranch b, []) =>                         (* dirty branch: `db/branch` is the branch's working set *)
-           match branch_working r b with
-           | Some w => match assoc t (d_schema w) with
-                       | Some cols => ans_eqb a (ARows cols (rows_of t (d_data w)))
-                       | None => is_error a
-                       end
-           | None => is_error a
-           end
-         | _ => match a with ARows _ _ | AHist _ _ => want_commit r v t a | _ => true end   (* refusing is fine; rows must be the right ones *)
-         end
-a    if revdb_denotes r v then want_commit r v t a
-    else match (norm_base r (fst v), snd v) with
-         | (BBranch b, []) =>                         (* dirty branch: `db/branch` is the branch's working set *)
-           match branch_working r b with
-           | Some w => match assoc t (d_schema w) with
-                       | Some cols => ans_eqb a (ARows cols (rows_of t (d_data w)))
-                       | None => is_error a
-                       end
-           | None => is_error a
-           end
-         | _ => match a with ARows _ _ | AHist _ _ => want_commit r v t a | _ => true end   (* refusing is fine; rows must be the right ones *)
-         end
-n    if revdb_denotes r v then want_commit r v t a
-    else match (norm_base r (fst v), snd v) with
-         | (BBranch b, []) =>                         (* dirty branch: `db/branch` is the branch's working set *)
-           match branch_working r b with
-           | Some w => match assoc t (d_schema w) with
-                       | Some cols => ans_eqb a (ARows cols (rows_of t (d_data w)))
-                       | None => is_error a
-                       end
-           | None => is_error a
-           end
-         | _ => match a with ARows _ _ | AHist _ _ => want_commit r v t a | _ => true end   (* refusing is fine; rows must be the right ones *)
-         end
-c    if revdb_denotes r v then want_commit r v t a
-    else match (norm_base r (fst v), snd v) with
-         | (BBranch b, []) =>                         (* dirty branch: `db/branch` is the branch's working set *)
-           match branch_working r b with
-           | Some w => match assoc t (d_schema w) with
-                       | Some cols => ans_eqb a (ARows cols (rows_of t (d_data w)))
-                       | None => is_error a
-                       end
-           | None => is_error a
-           end
-         | _ => match a with ARows _ _ | AHist _ _ => want_commit r v t a | _ => true end   (* refusing is fine; rows must be the right ones *)
-         end
-h    if revdb_denotes r v then want_commit r v t a
-    else match (norm_base r (fst v), snd v) with
-         | (BBranch b, []) =>                         (* dirty branch: `db/branch` is the branch's working set *)
-           match branch_working r b with
-           | Some w => match assoc t (d_schema w) with
-                       | Some cols => ans_eqb a (ARows cols (rows_of t (d_data w)))
-                       | None => is_error a
-                       end
-           | None => is_error a
-           end
-         | _ => match a with ARows _ _ | AHist _ _ => want_commit r v t a | _ => true end   (* refusing is fine; rows must be the right ones *)
-         end
-     if revdb_denotes r v then want_commit r v t a
-    else match (norm_base r (fst v), snd v) with
-         | (BBranch b, []) =>                         (* dirty branch: `db/branch` is the branch's working set *)
-           match branch_working r b with
-           | Some w => match assoc t (d_schema w) with
-                       | Some cols => ans_eqb a (ARows cols (rows_of t (d_data w)))
-                       | None => is_error a
-                       end
-           | None => is_error a
-           end
-         | _ => match a with ARows _ _ | AHist _ _ => want_commit r v t a | _ => true end   (* refusing is fine; rows must be the right ones *)
-         end
-w    if revdb_denotes r v then want_commit r v t a
-    else match (norm_base r (fst v), snd v) with
-         | (BBranch b, []) =>                         (* dirty branch: `db/branch` is the branch's working set *)
-           match branch_working r b with
-           | Some w => match assoc t (d_schema w) with
-                       | Some cols => ans_eqb a (ARows cols (rows_of t (d_data w)))
-                       | None => is_error a
-                       end
-           | None => is_error a
-           end
-         | _ => match a with ARows _ _ | AHist _ _ => want_commit r v t a | _ => true end   (* refusing is fine; rows must be the right ones *)
-         end
-i    if revdb_denotes r v then want_commit r v t a
-    else match (norm_base r (fst v), snd v) with
-         | (BBranch b, []) =>                         (* dirty branch: `db/branch` is the branch's working set *)
-           match branch_working r b with
-           | Some w => match assoc t (d_schema w) with
-                       | Some cols => ans_eqb a (ARows cols (rows_of t (d_data w)))
-                       | None => is_error a
-                       end
-           | None => is_error a
-           end
-         | _ => match a with ARows _ _ | AHist _ _ => want_commit r v t a | _ => true end   (* refusing is fine; rows must be the right ones *)
-         end
-t    if revdb_denotes r v then want_commit r v t a
-    else match (norm_base r (fst v), snd v) with
-         | (BBranch b, []) =>                         (* dirty branch: `db/branch` is the branch's working set *)
-           match branch_working r b with
-           | Some w => match assoc t (d_schema w) with
-                       | Some cols => ans_eqb a (ARows cols (rows_of t (d_data w)))
-                       | None => is_error a
-                       end
-           | None => is_error a
-           end
-         | _ => match a with ARows _ _ | AHist _ _ => want_commit r v t a | _ => true end   (* refusing is fine; rows must be the right ones *)
-         end
-h    if revdb_denotes r v then want_commit r v t a
-    else match (norm_base r (fst v), snd v) with
-         | (BBranch b, []) =>                         (* dirty branch: `db/branch` is the branch's working set *)
-           match branch_working r b with
-           | Some w => match assoc t (d_schema w) with
-                       | Some cols => ans_eqb a (ARows cols (rows_of t (d_data w)))
-                       | None => is_error a
-                       end
-           | None => is_error a
-           end
-         | _ => match a with ARows _ _ | AHist _ _ => want_commit r v t a | _ => true end   (* refusing is fine; rows must be the right ones *)
-         end
-     if revdb_denotes r v then want_commit r v t a
-    else match (norm_base r (fst v), snd v) with
-         | (BBranch b, []) =>                         (* dirty branch: `db/branch` is the branch's working set *)
-           match branch_working r b with
-           | Some w => match assoc t (d_schema w) with
-                       | Some cols => ans_eqb a (ARows cols (rows_of t (d_data w)))
-                       | None => is_error a
-                       end
-           | None => is_error a
-           end
-         | _ => match a with ARows _ _ | AHist _ _ => want_commit r v t a | _ => true end   (* refusing is fine; rows must be the right ones *)
-         end
-i    if revdb_denotes r v then want_commit r v t a
-    else match (norm_base r (fst v), snd v) with
-         | (BBranch b, []) =>                         (* dirty branch: `db/branch` is the branch's working set *)
-           match branch_working r b with
-           | Some w => match assoc t (d_schema w) with
-                       | Some cols => ans_eqb a (ARows cols (rows_of t (d_data w)))
-                       | None => is_error a
-                       end
-           | None => is_error a
-           end
-         | _ => match a with ARows _ _ | AHist _ _ => want_commit r v t a | _ => true end   (* refusing is fine; rows must be the right ones *)
-         end
-t    if revdb_denotes r v then want_commit r v t a
-    else match (norm_base r (fst v), snd v) with
-         | (BBranch b, []) =>                         (* dirty branch: `db/branch` is the branch's working set *)
-           match branch_working r b with
-           | Some w => match assoc t (d_schema w) with
-                       | Some cols => ans_eqb a (ARows cols (rows_of t (d_data w)))
-                       | None => is_error a
-                       end
-           | None => is_error a
-           end
-         | _ => match a with ARows _ _ | AHist _ _ => want_commit r v t a | _ => true end   (* refusing is fine; rows must be the right ones *)
-         end
-s    if revdb_denotes r v then want_commit r v t a
-    else match (norm_base r (fst v), snd v) with
-         | (BBranch b, []) =>                         (* dirty branch: `db/branch` is the branch's working set *)
-           match branch_working r b with
-           | Some w => match assoc t (d_schema w) with
-                       | Some cols => ans_eqb a (ARows cols (rows_of t (d_data w)))
-                       | None => is_error a
-                       end
-           | None => is_error a
-           end
-         | _ => match a with ARows _ _ | AHist _ _ => want_commit r v t a | _ => true end   (* refusing is fine; rows must be the right ones *)
-         end
-     if revdb_denotes r v then want_commit r v t a
-    else match (norm_base r (fst v), snd v) with
-         | (BBranch b, []) =>                         (* dirty branch: `db/branch` is the branch's working set *)
-           match branch_working r b with
-           | Some w => match assoc t (d_schema w) with
-                       | Some cols => ans_eqb a (ARows cols (rows_of t (d_data w)))
-                       | None => is_error a
-                       end
-           | None => is_error a
-           end
-         | _ => match a with ARows _ _ | AHist _ _ => want_commit r v t a | _ => true end   (* refusing is fine; rows must be the right ones *)
-         end
-h    if revdb_denotes r v then want_commit r v t a
-    else match (norm_base r (fst v), snd v) with
-         | (BBranch b, []) =>                         (* dirty branch: `db/branch` is the branch's working set *)
-           match branch_working r b with
-           | Some w => match assoc t (d_schema w) with
-                       | Some cols => ans_eqb a (ARows cols (rows_of t (d_data w)))
-                       | None => is_error a
-                       end
-           | None => is_error a
-           end
-         | _ => match a with ARows _ _ | AHist _ _ => want_commit r v t a | _ => true end   (* refusing is fine; rows must be the right ones *)
-         end
-e    if revdb_denotes r v then want_commit r v t a
-    else match (norm_base r (fst v), snd v) with
-         | (BBranch b, []) =>                         (* dirty branch: `db/branch` is the branch's working set *)
-           match branch_working r b with
-           | Some w => match assoc t (d_schema w) with
-                       | Some cols => ans_eqb a (ARows cols (rows_of t (d_data w)))
-                       | None => is_error a
-                       end
-           | None => is_error a
-           end
-         | _ => match a with ARows _ _ | AHist _ _ => want_commit r v t a | _ => true end   (* refusing is fine; rows must be the right ones *)
-         end
-a    if revdb_denotes r v then want_commit r v t a
-    else match (norm_base r (fst v), snd v) with
-         | (BBranch b, []) =>                         (* dirty branch: `db/branch` is the branch's working set *)
-           match branch_working r b with
-           | Some w => match assoc t (d_schema w) with
-                       | Some cols => ans_eqb a (ARows cols (rows_of t (d_data w)))
-                       | None => is_error a
-                       end
-           | None => is_error a
-           end
-         | _ => match a with ARows _ _ | AHist _ _ => want_commit r v t a | _ => true end   (* refusing is fine; rows must be the right ones *)
-         end
-d    if revdb_denotes r v then want_commit r v t a
-    else match (norm_base r (fst v), snd v) with
-         | (BBranch b, []) =>                         (* dirty branch: `db/branch` is the branch's working set *)
-           match branch_working r b with
-           | Some w => match assoc t (d_schema w) with
-                       | Some cols => ans_eqb a (ARows cols (rows_of t (d_data w)))
-                       | None => is_error a
-                       end
-           | None => is_error a
-           end
-         | _ => match a with ARows _ _ | AHist _ _ => want_commit r v t a | _ => true end   (* refusing is fine; rows must be the right ones *)
-         end
-     if revdb_denotes r v then want_commit r v t a
-    else match (norm_base r (fst v), snd v) with
-         | (BBranch b, []) =>                         (* dirty branch: `db/branch` is the branch's working set *)
-           match branch_working r b with
-           | Some w => match assoc t (d_schema w) with
-                       | Some cols => ans_eqb a (ARows cols (rows_of t (d_data w)))
-                       | None => is_error a
-                       end
-           | None => is_error a
-           end
-         | _ => match a with ARows _ _ | AHist _ _ => want_commit r v t a | _ => true end   (* refusing is fine; rows must be the right ones *)
-         end
-a    if revdb_denotes r v then want_commit r v t a
-    else match (norm_base r (fst v), snd v) with
-         | (BBranch b, []) =>                         (* dirty branch: `db/branch` is the branch's working set *)
-           match branch_working r b with
-           | Some w => match assoc t (d_schema w) with
-                       | Some cols => ans_eqb a (ARows cols (rows_of t (d_data w)))
-                       | None => is_error a
-                       end
-           | None => is_error a
-           end
-         | _ => match a with ARows _ _ | AHist _ _ => want_commit r v t a | _ => true end   (* refusing is fine; rows must be the right ones *)
-         end
-n    if revdb_denotes r v then want_commit r v t a
-    else match (norm_base r (fst v), snd v) with
-         | (BBranch b, []) =>                         (* dirty branch: `db/branch` is the branch's working set *)
-           match branch_working r b with
-           | Some w => match assoc t (d_schema w) with
-                       | Some cols => ans_eqb a (ARows cols (rows_of t (d_data w)))
-                       | None => is_error a
-                       end
-           | None => is_error a
-           end
-         | _ => match a with ARows _ _ | AHist _ _ => want_commit r v t a | _ => true end   (* refusing is fine; rows must be the right ones *)
-         end
-d    if revdb_denotes r v then want_commit r v t a
-    else match (norm_base r (fst v), snd v) with
-         | (BBranch b, []) =>                         (* dirty branch: `db/branch` is the branch's working set *)
-           match branch_working r b with
-           | Some w => match assoc t (d_schema w) with
-                       | Some cols => ans_eqb a (ARows cols (rows_of t (d_data w)))
-                       | None => is_error a
-                       end
-           | None => is_error a
-           end
-         | _ => match a with ARows _ _ | AHist _ _ => want_commit r v t a | _ => true end   (* refusing is fine; rows must be the right ones *)
-         end
-     if revdb_denotes r v then want_commit r v t a
-    else match (norm_base r (fst v), snd v) with
-         | (BBranch b, []) =>                         (* dirty branch: `db/branch` is the branch's working set *)
-           match branch_working r b with
-           | Some w => match assoc t (d_schema w) with
-                       | Some cols => ans_eqb a (ARows cols (rows_of t (d_data w)))
-                       | None => is_error a
-                       end
-           | None => is_error a
-           end
-         | _ => match a with ARows _ _ | AHist _ _ => want_commit r v t a | _ => true end   (* refusing is fine; rows must be the right ones *)
-         end
-l    if revdb_denotes r v then want_commit r v t a
-    else match (norm_base r (fst v), snd v) with
-         | (BBranch b, []) =>                         (* dirty branch: `db/branch` is the branch's working set *)
-           match branch_working r b with
-           | Some w => match assoc t (d_schema w) with
-                       | Some cols => ans_eqb a (ARows cols (rows_of t (d_data w)))
-                       | None => is_error a
-                       end
-           | None => is_error a
-           end
-         | _ => match a with ARows _ _ | AHist _ _ => want_commit r v t a | _ => true end   (* refusing is fine; rows must be the right ones *)
-         end
-a    if revdb_denotes r v then want_commit r v t a
-    else match (norm_base r (fst v), snd v) with
-         | (BBranch b, []) =>                         (* dirty branch: `db/branch` is the branch's working set *)
-           match branch_working r b with
-           | Some w => match assoc t (d_schema w) with
-                       | Some cols => ans_eqb a (ARows cols (rows_of t (d_data w)))
-                       | None => is_error a
-                       end
-           | None => is_error a
-           end
-         | _ => match a with ARows _ _ | AHist _ _ => want_commit r v t a | _ => true end   (* refusing is fine; rows must be the right ones *)
-         end
-s    if revdb_denotes r v then want_commit r v t a
-    else match (norm_base r (fst v), snd v) with
-         | (BBranch b, []) =>                         (* dirty branch: `db/branch` is the branch's working set *)
-           match branch_working r b with
-           | Some w => match assoc t (d_schema w) with
-                       | Some cols => ans_eqb a (ARows cols (rows_of t (d_data w)))
-                       | None => is_error a
-                       end
-           | None => is_error a
-           end
-         | _ => match a with ARows _ _ | AHist _ _ => want_commit r v t a | _ => true end   (* refusing is fine; rows must be the right ones *)
-         end
-t    if revdb_denotes r v then want_commit r v t a
-    else match (norm_base r (fst v), snd v) with
-         | (BBranch b, []) =>                         (* dirty branch: `db/branch` is the branch's working set *)
-           match branch_working r b with
-           | Some w => match assoc t (d_schema w) with
-                       | Some cols => ans_eqb a (ARows cols (rows_of t (d_data w)))
-                       | None => is_error a
-                       end
-           | None => is_error a
-           end
-         | _ => match a with ARows _ _ | AHist _ _ => want_commit r v t a | _ => true end   (* refusing is fine; rows must be the right ones *)
-         end
-     if revdb_denotes r v then want_commit r v t a
-    else match (norm_base r (fst v), snd v) with
-         | (BBranch b, []) =>                         (* dirty branch: `db/branch` is the branch's working set *)
-           match branch_working r b with
-           | Some w => match assoc t (d_schema w) with
-                       | Some cols => ans_eqb a (ARows cols (rows_of t (d_data w)))
-                       | None => is_error a
-                       end
-           | None => is_error a
-           end
-         | _ => match a with ARows _ _ | AHist _ _ => want_commit r v t a | _ => true end   (* refusing is fine; rows must be the right ones *)
-         end
-w    if revdb_denotes r v then want_commit r v t a
-    else match (norm_base r (fst v), snd v) with
-         | (BBranch b, []) =>                         (* dirty branch: `db/branch` is the branch's working set *)
-           match branch_working r b with
-           | Some w => match assoc t (d_schema w) with
-                       | Some cols => ans_eqb a (ARows cols (rows_of t (d_data w)))
-                       | None => is_error a
-                       end
-           | None => is_error a
-           end
-         | _ => match a with ARows _ _ | AHist _ _ => want_commit r v t a | _ => true end   (* refusing is fine; rows must be the right ones *)
-         end
-o    if revdb_denotes r v then want_commit r v t a
-    else match (norm_base r (fst v), snd v) with
-         | (BBranch b, []) =>                         (* dirty branch: `db/branch` is the branch's working set *)
-           match branch_working r b with
-           | Some w => match assoc t (d_schema w) with
-                       | Some cols => ans_eqb a (ARows cols (rows_of t (d_data w)))
-                       | None => is_error a
-                       end
-           | None => is_error a
-           end
-         | _ => match a with ARows _ _ | AHist _ _ => want_commit r v t a | _ => true end   (* refusing is fine; rows must be the right ones *)
-         end
-r    if revdb_denotes r v then want_commit r v t a
-    else match (norm_base r (fst v), snd v) with
-         | (BBranch b, []) =>                         (* dirty branch: `db/branch` is the branch's working set *)
-           match branch_working r b with
-           | Some w => match assoc t (d_schema w) with
-                       | Some cols => ans_eqb a (ARows cols (rows_of t (d_data w)))
-                       | None => is_error a
-                       end
-           | None => is_error a
-           end
-         | _ => match a with ARows _ _ | AHist _ _ => want_commit r v t a | _ => true end   (* refusing is fine; rows must be the right ones *)
-         end
-k    if revdb_denotes r v then want_commit r v t a
-    else match (norm_base r (fst v), snd v) with
-         | (BBranch b, []) =>                         (* dirty branch: `db/branch` is the branch's working set *)
-           match branch_working r b with
-           | Some w => match assoc t (d_schema w) with
-                       | Some cols => ans_eqb a (ARows cols (rows_of t (d_data w)))
-                       | None => is_error a
-                       end
-           | None => is_error a
-           end
-         | _ => match a with ARows _ _ | AHist _ _ => want_commit r v t a | _ => true end   (* refusing is fine; rows must be the right ones *)
-         end
-i    if revdb_denotes r v then want_commit r v t a
-    else match (norm_base r (fst v), snd v) with
-         | (BBranch b, []) =>                         (* dirty branch: `db/branch` is the branch's working set *)
-           match branch_working r b with
-           | Some w => match assoc t (d_schema w) with
-                       | Some cols => ans_eqb a (ARows cols (rows_of t (d_data w)))
-                       | None => is_error a
-                       end
-           | None => is_error a
-           end
-         | _ => match a with ARows _ _ | AHist _ _ => want_commit r v t a | _ => true end   (* refusing is fine; rows must be the right ones *)
-         end
-n    if revdb_denotes r v then want_commit r v t a
-    else match (norm_base r (fst v), snd v) with
-         | (BBranch b, []) =>                         (* dirty branch: `db/branch` is the branch's working set *)
-           match branch_working r b with
-           | Some w => match assoc t (d_schema w) with
-                       | Some cols => ans_eqb a (ARows cols (rows_of t (d_data w)))
-                       | None => is_error a
-                       end
-           | None => is_error a
-           end
-         | _ => match a with ARows _ _ | AHist _ _ => want_commit r v t a | _ => true end   (* refusing is fine; rows must be the right ones *)
-         end
-g    if revdb_denotes r v then want_commit r v t a
-    else match (norm_base r (fst v), snd v) with
-         | (BBranch b, []) =>                         (* dirty branch: `db/branch` is the branch's working set *)
-           match branch_working r b with
-           | Some w => match assoc t (d_schema w) with
-                       | Some cols => ans_eqb a (ARows cols (rows_of t (d_data w)))
-                       | None => is_error a
-                       end
-           | None => is_error a
-           end
-         | _ => match a with ARows _ _ | AHist _ _ => want_commit r v t a | _ => true end   (* refusing is fine; rows must be the right ones *)
-         end
-     if revdb_denotes r v then want_commit r v t a
-    else match (norm_base r (fst v), snd v) with
-         | (BBranch b, []) =>                         (* dirty branch: `db/branch` is the branch's working set *)
-           match branch_working r b with
-           | Some w => match assoc t (d_schema w) with
-                       | Some cols => ans_eqb a (ARows cols (rows_of t (d_data w)))
-                       | None => is_error a
-                       end
-           | None => is_error a
-           end
-         | _ => match a with ARows _ _ | AHist _ _ => want_commit r v t a | _ => true end   (* refusing is fine; rows must be the right ones *)
-         end
-s    if revdb_denotes r v then want_commit r v t a
-    else match (norm_base r (fst v), snd v) with
-         | (BBranch b, []) =>                         (* dirty branch: `db/branch` is the branch's working set *)
-           match branch_working r b with
-           | Some w => match assoc t (d_schema w) with
-                       | Some cols => ans_eqb a (ARows cols (rows_of t (d_data w)))
-                       | None => is_error a
-                       end
-           | None => is_error a
-           end
-         | _ => match a with ARows _ _ | AHist _ _ => want_commit r v t a | _ => true end   (* refusing is fine; rows must be the right ones *)
-         end
-e    if revdb_denotes r v then want_commit r v t a
-    else match (norm_base r (fst v), snd v) with
-         | (BBranch b, []) =>                         (* dirty branch: `db/branch` is the branch's working set *)
-           match branch_working r b with
-           | Some w => match assoc t (d_schema w) with
-                       | Some cols => ans_eqb a (ARows cols (rows_of t (d_data w)))
-                       | None => is_error a
-                       end
-           | None => is_error a
-           end
-         | _ => match a with ARows _ _ | AHist _ _ => want_commit r v t a | _ => true end   (* refusing is fine; rows must be the right ones *)
-         end
-t    if revdb_denotes r v then want_commit r v t a
-    else match (norm_base r (fst v), snd v) with
-         | (BBranch b, []) =>                         (* dirty branch: `db/branch` is the branch's working set *)
-           match branch_working r b with
-           | Some w => match assoc t (d_schema w) with
-                       | Some cols => ans_eqb a (ARows cols (rows_of t (d_data w)))
-                       | None => is_error a
-                       end
-           | None => is_error a
-           end
-         | _ => match a with ARows _ _ | AHist _ _ => want_commit r v t a | _ => true end   (* refusing is fine; rows must be the right ones *)
-         end
-,    if revdb_denotes r v then want_commit r v t a
-    else match (norm_base r (fst v), snd v) with
-         | (BBranch b, []) =>                         (* dirty branch: `db/branch` is the branch's working set *)
-           match branch_working r b with
-           | Some w => match assoc t (d_schema w) with
-                       | Some cols => ans_eqb a (ARows cols (rows_of t (d_data w)))
-                       | None => is_error a
-                       end
-           | None => is_error a
-           end
-         | _ => match a with ARows _ _ | AHist _ _ => want_commit r v t a | _ => true end   (* refusing is fine; rows must be the right ones *)
-         end
-     if revdb_denotes r v then want_commit r v t a
-    else match (norm_base r (fst v), snd v) with
-         | (BBranch b, []) =>                         (* dirty branch: `db/branch` is the branch's working set *)
-           match branch_working r b with
-           | Some w => match assoc t (d_schema w) with
-                       | Some cols => ans_eqb a (ARows cols (rows_of t (d_data w)))
-                       | None => is_error a
-                       end
-           | None => is_error a
-           end
-         | _ => match a with ARows _ _ | AHist _ _ => want_commit r v t a | _ => true end   (* refusing is fine; rows must be the right ones *)
-         end
-t    if revdb_denotes r v then want_commit r v t a
-    else match (norm_base r (fst v), snd v) with
-         | (BBranch b, []) =>                         (* dirty branch: `db/branch` is the branch's working set *)
-           match branch_working r b with
-           | Some w => match assoc t (d_schema w) with
-                       | Some cols => ans_eqb a (ARows cols (rows_of t (d_data w)))
-                       | None => is_error a
-                       end
-           | None => is_error a
-           end
-         | _ => match a with ARows _ _ | AHist _ _ => want_commit r v t a | _ => true end   (* refusing is fine; rows must be the right ones *)
-         end
-a    if revdb_denotes r v then want_commit r v t a
-    else match (norm_base r (fst v), snd v) with
-         | (BBranch b, []) =>                         (* dirty branch: `db/branch` is the branch's working set *)
-           match branch_working r b with
-           | Some w => match assoc t (d_schema w) with
-                       | Some cols => ans_eqb a (ARows cols (rows_of t (d_data w)))
-                       | None => is_error a
-                       end
-           | None => is_error a
-           end
-         | _ => match a with ARows _ _ | AHist _ _ => want_commit r v t a | _ => true end   (* refusing is fine; rows must be the right ones *)
-         end
-g    if revdb_denotes r v then want_commit r v t a
-    else match (norm_base r (fst v), snd v) with
-         | (BBranch b, []) =>                         (* dirty branch: `db/branch` is the branch's working set *)
-           match branch_working r b with
-           | Some w => match assoc t (d_schema w) with
-                       | Some cols => ans_eqb a (ARows cols (rows_of t (d_data w)))
-                       | None => is_error a
-                       end
-           | None => is_error a
-           end
-         | _ => match a with ARows _ _ | AHist _ _ => want_commit r v t a | _ => true end   (* refusing is fine; rows must be the right ones *)
-         end
-s    if revdb_denotes r v then want_commit r v t a
-    else match (norm_base r (fst v), snd v) with
-         | (BBranch b, []) =>                         (* dirty branch: `db/branch` is the branch's working set *)
-           match branch_working r b with
-           | Some w => match assoc t (d_schema w) with
-                       | Some cols => ans_eqb a (ARows cols (rows_of t (d_data w)))
-                       | None => is_error a
-                       end
-           | None => is_error a
-           end
-         | _ => match a with ARows _ _ | AHist _ _ => want_commit r v t a | _ => true end   (* refusing is fine; rows must be the right ones *)
-         end
-,    if revdb_denotes r v then want_commit r v t a
-    else match (norm_base r (fst v), snd v) with
-         | (BBranch b, []) =>                         (* dirty branch: `db/branch` is the branch's working set *)
-           match branch_working r b with
-           | Some w => match assoc t (d_schema w) with
-                       | Some cols => ans_eqb a (ARows cols (rows_of t (d_data w)))
-                       | None => is_error a
-                       end
-           | None => is_error a
-           end
-         | _ => match a with ARows _ _ | AHist _ _ => want_commit r v t a | _ => true end   (* refusing is fine; rows must be the right ones *)
-         end
-     if revdb_denotes r v then want_commit r v t a
-    else match (norm_base r (fst v), snd v) with
-         | (BBranch b, []) =>                         (* dirty branch: `db/branch` is the branch's working set *)
-           match branch_working r b with
-           | Some w => match assoc t (d_schema w) with
-                       | Some cols => ans_eqb a (ARows cols (rows_of t (d_data w)))
-                       | None => is_error a
-                       end
-           | None => is_error a
-           end
-         | _ => match a with ARows _ _ | AHist _ _ => want_commit r v t a | _ => true end   (* refusing is fine; rows must be the right ones *)
-         end
-t    if revdb_denotes r v then want_commit r v t a
-    else match (norm_base r (fst v), snd v) with
-         | (BBranch b, []) =>                         (* dirty branch: `db/branch` is the branch's working set *)
-           match branch_working r b with
-           | Some w => match assoc t (d_schema w) with
-                       | Some cols => ans_eqb a (ARows cols (rows_of t (d_data w)))
-                       | None => is_error a
-                       end
-           | None => is_error a
-           end
-         | _ => match a with ARows _ _ | AHist _ _ => want_commit r v t a | _ => true end   (* refusing is fine; rows must be the right ones *)
-         end
-h    if revdb_denotes r v then want_commit r v t a
-    else match (norm_base r (fst v), snd v) with
-         | (BBranch b, []) =>                         (* dirty branch: `db/branch` is the branch's working set *)
-           match branch_working r b with
-           | Some w => match assoc t (d_schema w) with
-                       | Some cols => ans_eqb a (ARows cols (rows_of t (d_data w)))
-                       | None => is_error a
-                       end
-           | None => is_error a
-           end
-         | _ => match a with ARows _ _ | AHist _ _ => want_commit r v t a | _ => true end   (* refusing is fine; rows must be the right ones *)
-         end
-e    if revdb_denotes r v then want_commit r v t a
-    else match (norm_base r (fst v), snd v) with
-         | (BBranch b, []) =>                         (* dirty branch: `db/branch` is the branch's working set *)
-           match branch_working r b with
-           | Some w => match assoc t (d_schema w) with
-                       | Some cols => ans_eqb a (ARows cols (rows_of t (d_data w)))
-                       | None => is_error a
-                       end
-           | None => is_error a
-           end
-         | _ => match a with ARows _ _ | AHist _ _ => want_commit r v t a | _ => true end   (* refusing is fine; rows must be the right ones *)
-         end
-     if revdb_denotes r v then want_commit r v t a
-    else match (norm_base r (fst v), snd v) with
-         | (BBranch b, []) =>                         (* dirty branch: `db/branch` is the branch's working set *)
-           match branch_working r b with
-           | Some w => match assoc t (d_schema w) with
-                       | Some cols => ans_eqb a (ARows cols (rows_of t (d_data w)))
-                       | None => is_error a
-                       end
-           | None => is_error a
-           end
-         | _ => match a with ARows _ _ | AHist _ _ => want_commit r v t a | _ => true end   (* refusing is fine; rows must be the right ones *)
-         end
-s    if revdb_denotes r v then want_commit r v t a
-    else match (norm_base r (fst v), snd v) with
-         | (BBranch b, []) =>                         (* dirty branch: `db/branch` is the branch's working set *)
-           match branch_working r b with
-           | Some w => match assoc t (d_schema w) with
-                       | Some cols => ans_eqb a (ARows cols (rows_of t (d_data w)))
-                       | None => is_error a
-                       end
-           | None => is_error a
-           end
-         | _ => match a with ARows _ _ | AHist _ _ => want_commit r v t a | _ => true end   (* refusing is fine; rows must be the right ones *)
-         end
-e    if revdb_denotes r v then want_commit r v t a
-    else match (norm_base r (fst v), snd v) with
-         | (BBranch b, []) =>                         (* dirty branch: `db/branch` is the branch's working set *)
-           match branch_working r b with
-           | Some w => match assoc t (d_schema w) with
-                       | Some cols => ans_eqb a (ARows cols (rows_of t (d_data w)))
-                       | None => is_error a
-                       end
-           | None => is_error a
-           end
-         | _ => match a with ARows _ _ | AHist _ _ => want_commit r v t a | _ => true end   (* refusing is fine; rows must be the right ones *)
-         end
-s    if revdb_denotes r v then want_commit r v t a
-    else match (norm_base r (fst v), snd v) with
-         | (BBranch b, []) =>                         (* dirty branch: `db/branch` is the branch's working set *)
-           match branch_working r b with
-           | Some w => match assoc t (d_schema w) with
-                       | Some cols => ans_eqb a (ARows cols (rows_of t (d_data w)))
-                       | None => is_error a
-                       end
-           | None => is_error a
-           end
-         | _ => match a with ARows _ _ | AHist _ _ => want_commit r v t a | _ => true end   (* refusing is fine; rows must be the right ones *)
-         end
-s    if revdb_denotes r v then want_commit r v t a
-    else match (norm_base r (fst v), snd v) with
-         | (BBranch b, []) =>                         (* dirty branch: `db/branch` is the branch's working set *)
-           match branch_working r b with
-           | Some w => match assoc t (d_schema w) with
-                       | Some cols => ans_eqb a (ARows cols (rows_of t (d_data w)))
-                       | None => is_error a
-                       end
-           | None => is_error a
-           end
-         | _ => match a with ARows _ _ | AHist _ _ => want_commit r v t a | _ => true end   (* refusing is fine; rows must be the right ones *)
-         end
-i    if revdb_denotes r v then want_commit r v t a
-    else match (norm_base r (fst v), snd v) with
-         | (BBranch b, []) =>                         (* dirty branch: `db/branch` is the branch's working set *)
-           match branch_working r b with
-           | Some w => match assoc t (d_schema w) with
-                       | Some cols => ans_eqb a (ARows cols (rows_of t (d_data w)))
-                       | None => is_error a
-                       end
-           | None => is_error a
-           end
-         | _ => match a with ARows _ _ | AHist _ _ => want_commit r v t a | _ => true end   (* refusing is fine; rows must be the right ones *)
-         end
-o    if revdb_denotes r v then want_commit r v t a
-    else match (norm_base r (fst v), snd v) with
-         | (BBranch b, []) =>                         (* dirty branch: `db/branch` is the branch's working set *)
-           match branch_working r b with
-           | Some w => match assoc t (d_schema w) with
-                       | Some cols => ans_eqb a (ARows cols (rows_of t (d_data w)))
-                       | None => is_error a
-                       end
-           | None => is_error a
-           end
-         | _ => match a with ARows _ _ | AHist _ _ => want_commit r v t a | _ => true end   (* refusing is fine; rows must be the right ones *)
-         end
-n    if revdb_denotes r v then want_commit r v t a
-    else match (norm_base r (fst v), snd v) with
-         | (BBranch b, []) =>                         (* dirty branch: `db/branch` is the branch's working set *)
-           match branch_working r b with
-           | Some w => match assoc t (d_schema w) with
-                       | Some cols => ans_eqb a (ARows cols (rows_of t (d_data w)))
-                       | None => is_error a
-                       end
-           | None => is_error a
-           end
-         | _ => match a with ARows _ _ | AHist _ _ => want_commit r v t a | _ => true end   (* refusing is fine; rows must be the right ones *)
-         end
-     if revdb_denotes r v then want_commit r v t a
-    else match (norm_base r (fst v), snd v) with
-         | (BBranch b, []) =>                         (* dirty branch: `db/branch` is the branch's working set *)
-           match branch_working r b with
-           | Some w => match assoc t (d_schema w) with
-                       | Some cols => ans_eqb a (ARows cols (rows_of t (d_data w)))
-                       | None => is_error a
-                       end
-           | None => is_error a
-           end
-         | _ => match a with ARows _ _ | AHist _ _ => want_commit r v t a | _ => true end   (* refusing is fine; rows must be the right ones *)
-         end
-b    if revdb_denotes r v then want_commit r v t a
-    else match (norm_base r (fst v), snd v) with
-         | (BBranch b, []) =>                         (* dirty branch: `db/branch` is the branch's working set *)
-           match branch_working r b with
-           | Some w => match assoc t (d_schema w) with
-                       | Some cols => ans_eqb a (ARows cols (rows_of t (d_data w)))
-                       | None => is_error a
-                       end
-           | None => is_error a
-           end
-         | _ => match a with ARows _ _ | AHist _ _ => want_commit r v t a | _ => true end   (* refusing is fine; rows must be the right ones *)
-         end
-r    if revdb_denotes r v then want_commit r v t a
-    else match (norm_base r (fst v), snd v) with
-         | (BBranch b, []) =>                         (* dirty branch: `db/branch` is the branch's working set *)
-           match branch_working r b with
-           | Some w => match assoc t (d_schema w) with
-                       | Some cols => ans_eqb a (ARows cols (rows_of t (d_data w)))
-                       | None => is_error a
-                       end
-           | None => is_error a
-           end
-         | _ => match a with ARows _ _ | AHist _ _ => want_commit r v t a | _ => true end   (* refusing is fine; rows must be the right ones *)
-         end
-a    if revdb_denotes r v then want_commit r v t a
-    else match (norm_base r (fst v), snd v) with
-         | (BBranch b, []) =>                         (* dirty branch: `db/branch` is the branch's working set *)
-           match branch_working r b with
-           | Some w => match assoc t (d_schema w) with
-                       | Some cols => ans_eqb a (ARows cols (rows_of t (d_data w)))
-                       | None => is_error a
-                       end
-           | None => is_error a
-           end
-         | _ => match a with ARows _ _ | AHist _ _ => want_commit r v t a | _ => true end   (* refusing is fine; rows must be the right ones *)
-         end
-n    if revdb_denotes r v then want_commit r v t a
-    else match (norm_base r (fst v), snd v) with
-         | (BBranch b, []) =>                         (* dirty branch: `db/branch` is the branch's working set *)
-           match branch_working r b with
-           | Some w => match assoc t (d_schema w) with
-                       | Some cols => ans_eqb a (ARows cols (rows_of t (d_data w)))
-                       | None => is_error a
-                       end
-           | None => is_error a
-           end
-         | _ => match a with ARows _ _ | AHist _ _ => want_commit r v t a | _ => true end   (* refusing is fine; rows must be the right ones *)
-         end
-c    if revdb_denotes r v then want_commit r v t a
-    else match (norm_base r (fst v), snd v) with
-         | (BBranch b, []) =>                         (* dirty branch: `db/branch` is the branch's working set *)
-           match branch_working r b with
-           | Some w => match assoc t (d_schema w) with
-                       | Some cols => ans_eqb a (ARows cols (rows_of t (d_data w)))
-                       | None => is_error a
-                       end
-           | None => is_error a
-           end
-         | _ => match a with ARows _ _ | AHist _ _ => want_commit r v t a | _ => true end   (* refusing is fine; rows must be the right ones *)
-         end
-h    if revdb_denotes r v then want_commit r v t a
-    else match (norm_base r (fst v), snd v) with
-         | (BBranch b, []) =>                         (* dirty branch: `db/branch` is the branch's working set *)
-           match branch_working r b with
-           | Some w => match assoc t (d_schema w) with
-                       | Some cols => ans_eqb a (ARows cols (rows_of t (d_data w)))
-                       | None => is_error a
-                       end
-           | None => is_error a
-           end
-         | _ => match a with ARows _ _ | AHist _ _ => want_commit r v t a | _ => true end   (* refusing is fine; rows must be the right ones *)
-         end
-)    if revdb_denotes r v then want_commit r v t a
-    else match (norm_base r (fst v), snd v) with
-         | (BBranch b, []) =>                         (* dirty branch: `db/branch` is the branch's working set *)
-           match branch_working r b with
-           | Some w => match assoc t (d_schema w) with
-                       | Some cols => ans_eqb a (ARows cols (rows_of t (d_data w)))
-                       | None => is_error a
-                       end
-           | None => is_error a
-           end
-         | _ => match a with ARows _ _ | AHist _ _ => want_commit r v t a | _ => true end   (* refusing is fine; rows must be the right ones *)
-         end
-     if revdb_denotes r v then want_commit r v t a
-    else match (norm_base r (fst v), snd v) with
-         | (BBranch b, []) =>                         (* dirty branch: `db/branch` is the branch's working set *)
-           match branch_working r b with
-           | Some w => match assoc t (d_schema w) with
-                       | Some cols => ans_eqb a (ARows cols (rows_of t (d_data w)))
-                       | None => is_error a
-                       end
-           | None => is_error a
-           end
-         | _ => match a with ARows _ _ | AHist _ _ => want_commit r v t a | _ => true end   (* refusing is fine; rows must be the right ones *)
-         end
-a    if revdb_denotes r v then want_commit r v t a
-    else match (norm_base r (fst v), snd v) with
-         | (BBranch b, []) =>                         (* dirty branch: `db/branch` is the branch's working set *)
-           match branch_working r b with
-           | Some w => match assoc t (d_schema w) with
-                       | Some cols => ans_eqb a (ARows cols (rows_of t (d_data w)))
-                       | None => is_error a
-                       end
-           | None => is_error a
-           end
-         | _ => match a with ARows _ _ | AHist _ _ => want_commit r v t a | _ => true end   (* refusing is fine; rows must be the right ones *)
-         end
-n    if revdb_denotes r v then want_commit r v t a
-    else match (norm_base r (fst v), snd v) with
-         | (BBranch b, []) =>                         (* dirty branch: `db/branch` is the branch's working set *)
-           match branch_working r b with
-           | Some w => match assoc t (d_schema w) with
-                       | Some cols => ans_eqb a (ARows cols (rows_of t (d_data w)))
-                       | None => is_error a
-                       end
-           | None => is_error a
-           end
-         | _ => match a with ARows _ _ | AHist _ _ => want_commit r v t a | _ => true end   (* refusing is fine; rows must be the right ones *)
-         end
-d    if revdb_denotes r v then want_commit r v t a
-    else match (norm_base r (fst v), snd v) with
-         | (BBranch b, []) =>                         (* dirty branch: `db/branch` is the branch's working set *)
-           match branch_working r b with
-           | Some w => match assoc t (d_schema w) with
-                       | Some cols => ans_eqb a (ARows cols (rows_of t (d_data w)))
-                       | None => is_error a
-                       end
-           | None => is_error a
-           end
-         | _ => match a with ARows _ _ | AHist _ _ => want_commit r v t a | _ => true end   (* refusing is fine; rows must be the right ones *)
-         end
-     if revdb_denotes r v then want_commit r v t a
-    else match (norm_base r (fst v), snd v) with
-         | (BBranch b, []) =>                         (* dirty branch: `db/branch` is the branch's working set *)
-           match branch_working r b with
-           | Some w => match assoc t (d_schema w) with
-                       | Some cols => ans_eqb a (ARows cols (rows_of t (d_data w)))
-                       | None => is_error a
-                       end
-           | None => is_error a
-           end
-         | _ => match a with ARows _ _ | AHist _ _ => want_commit r v t a | _ => true end   (* refusing is fine; rows must be the right ones *)
-         end
-t    if revdb_denotes r v then want_commit r v t a
-    else match (norm_base r (fst v), snd v) with
-         | (BBranch b, []) =>                         (* dirty branch: `db/branch` is the branch's working set *)
-           match branch_working r b with
-           | Some w => match assoc t (d_schema w) with
-                       | Some cols => ans_eqb a (ARows cols (rows_of t (d_data w)))
-                       | None => is_error a
-                       end
-           | None => is_error a
-           end
-         | _ => match a with ARows _ _ | AHist _ _ => want_commit r v t a | _ => true end   (* refusing is fine; rows must be the right ones *)
-         end
-h    if revdb_denotes r v then want_commit r v t a
-    else match (norm_base r (fst v), snd v) with
-         | (BBranch b, []) =>                         (* dirty branch: `db/branch` is the branch's working set *)
-           match branch_working r b with
-           | Some w => match assoc t (d_schema w) with
-                       | Some cols => ans_eqb a (ARows cols (rows_of t (d_data w)))
-                       | None => is_error a
-                       end
-           | None => is_error a
-           end
-         | _ => match a with ARows _ _ | AHist _ _ => want_commit r v t a | _ => true end   (* refusing is fine; rows must be the right ones *)
-         end
-e    if revdb_denotes r v then want_commit r v t a
-    else match (norm_base r (fst v), snd v) with
-         | (BBranch b, []) =>                         (* dirty branch: `db/branch` is the branch's working set *)
-           match branch_working r b with
-           | Some w => match assoc t (d_schema w) with
-                       | Some cols => ans_eqb a (ARows cols (rows_of t (d_data w)))
-                       | None => is_error a
-                       end
-           | None => is_error a
-           end
-         | _ => match a with ARows _ _ | AHist _ _ => want_commit r v t a | _ => true end   (* refusing is fine; rows must be the right ones *)
-         end
-
-    if revdb_denotes r v then want_commit r v t a
-    else match (norm_base r (fst v), snd v) with
-         | (BBranch b, []) =>                         (* dirty branch: `db/branch` is the branch's working set *)
-           match branch_working r b with
-           | Some w => match assoc t (d_schema w) with
-                       | Some cols => ans_eqb a (ARows cols (rows_of t (d_data w)))
-                       | None => is_error a
-                       end
-           | None => is_error a
-           end
-         | _ => match a with ARows _ _ | AHist _ _ => want_commit r v t a | _ => true end   (* refusing is fine; rows must be the right ones *)
-         end
-     if revdb_denotes r v then want_commit r v t a
-    else match (norm_base r (fst v), snd v) with
-         | (BBranch b, []) =>                         (* dirty branch: `db/branch` is the branch's working set *)
-           match branch_working r b with
-           | Some w => match assoc t (d_schema w) with
-                       | Some cols => ans_eqb a (ARows cols (rows_of t (d_data w)))
-                       | None => is_error a
-                       end
-           | None => is_error a
-           end
-         | _ => match a with ARows _ _ | AHist _ _ => want_commit r v t a | _ => true end   (* refusing is fine; rows must be the right ones *)
-         end
-     if revdb_denotes r v then want_commit r v t a
-    else match (norm_base r (fst v), snd v) with
-         | (BBranch b, []) =>                         (* dirty branch: `db/branch` is the branch's working set *)
-           match branch_working r b with
-           | Some w => match assoc t (d_schema w) with
-                       | Some cols => ans_eqb a (ARows cols (rows_of t (d_data w)))
-                       | None => is_error a
-                       end
-           | None => is_error a
-           end
-         | _ => match a with ARows _ _ | AHist _ _ => want_commit r v t a | _ => true end   (* refusing is fine; rows must be the right ones *)
-         end
-     if revdb_denotes r v then want_commit r v t a
-    else match (norm_base r (fst v), snd v) with
-         | (BBranch b, []) =>                         (* dirty branch: `db/branch` is the branch's working set *)
-           match branch_working r b with
-           | Some w => match assoc t (d_schema w) with
-                       | Some cols => ans_eqb a (ARows cols (rows_of t (d_data w)))
-                       | None => is_error a
-                       end
-           | None => is_error a
-           end
-         | _ => match a with ARows _ _ | AHist _ _ => want_commit r v t a | _ => true end   (* refusing is fine; rows must be the right ones *)
-         end
-l    if revdb_denotes r v then want_commit r v t a
-    else match (norm_base r (fst v), snd v) with
-         | (BBranch b, []) =>                         (* dirty branch: `db/branch` is the branch's working set *)
-           match branch_working r b with
-           | Some w => match assoc t (d_schema w) with
-                       | Some cols => ans_eqb a (ARows cols (rows_of t (d_data w)))
-                       | None => is_error a
-                       end
-           | None => is_error a
-           end
-         | _ => match a with ARows _ _ | AHist _ _ => want_commit r v t a | _ => true end   (* refusing is fine; rows must be the right ones *)
-         end
-i    if revdb_denotes r v then want_commit r v t a
-    else match (norm_base r (fst v), snd v) with
-         | (BBranch b, []) =>                         (* dirty branch: `db/branch` is the branch's working set *)
-           match branch_working r b with
-           | Some w => match assoc t (d_schema w) with
-                       | Some cols => ans_eqb a (ARows cols (rows_of t (d_data w)))
-                       | None => is_error a
-                       end
-           | None => is_error a
-           end
-         | _ => match a with ARows _ _ | AHist _ _ => want_commit r v t a | _ => true end   (* refusing is fine; rows must be the right ones *)
-         end
-s    if revdb_denotes r v then want_commit r v t a
-    else match (norm_base r (fst v), snd v) with
-         | (BBranch b, []) =>                         (* dirty branch: `db/branch` is the branch's working set *)
-           match branch_working r b with
-           | Some w => match assoc t (d_schema w) with
-                       | Some cols => ans_eqb a (ARows cols (rows_of t (d_data w)))
-                       | None => is_error a
-                       end
-           | None => is_error a
-           end
-         | _ => match a with ARows _ _ | AHist _ _ => want_commit r v t a | _ => true end   (* refusing is fine; rows must be the right ones *)
-         end
-t    if revdb_denotes r v then want_commit r v t a
-    else match (norm_base r (fst v), snd v) with
-         | (BBranch b, []) =>                         (* dirty branch: `db/branch` is the branch's working set *)
-           match branch_working r b with
-           | Some w => match assoc t (d_schema w) with
-                       | Some cols => ans_eqb a (ARows cols (rows_of t (d_data w)))
-                       | None => is_error a
-                       end
-           | None => is_error a
-           end
-         | _ => match a with ARows _ _ | AHist _ _ => want_commit r v t a | _ => true end   (* refusing is fine; rows must be the right ones *)
-         end
-     if revdb_denotes r v then want_commit r v t a
-    else match (norm_base r (fst v), snd v) with
-         | (BBranch b, []) =>                         (* dirty branch: `db/branch` is the branch's working set *)
-           match branch_working r b with
-           | Some w => match assoc t (d_schema w) with
-                       | Some cols => ans_eqb a (ARows cols (rows_of t (d_data w)))
-                       | None => is_error a
-                       end
-           | None => is_error a
-           end
-         | _ => match a with ARows _ _ | AHist _ _ => want_commit r v t a | _ => true end   (* refusing is fine; rows must be the right ones *)
-         end
-o    if revdb_denotes r v then want_commit r v t a
-    else match (norm_base r (fst v), snd v) with
-         | (BBranch b, []) =>                         (* dirty branch: `db/branch` is the branch's working set *)
-           match branch_working r b with
-           | Some w => match assoc t (d_schema w) with
-                       | Some cols => ans_eqb a (ARows cols (rows_of t (d_data w)))
-                       | None => is_error a
-                       end
-           | None => is_error a
-           end
-         | _ => match a with ARows _ _ | AHist _ _ => want_commit r v t a | _ => true end   (* refusing is fine; rows must be the right ones *)
-         end
-f    if revdb_denotes r v then want_commit r v t a
-    else match (norm_base r (fst v), snd v) with
-         | (BBranch b, []) =>                         (* dirty branch: `db/branch` is the branch's working set *)
-           match branch_working r b with
-           | Some w => match assoc t (d_schema w) with
-                       | Some cols => ans_eqb a (ARows cols (rows_of t (d_data w)))
-                       | None => is_error a
-                       end
-           | None => is_error a
-           end
-         | _ => match a with ARows _ _ | AHist _ _ => want_commit r v t a | _ => true end   (* refusing is fine; rows must be the right ones *)
-         end
-     if revdb_denotes r v then want_commit r v t a
-    else match (norm_base r (fst v), snd v) with
-         | (BBranch b, []) =>                         (* dirty branch: `db/branch` is the branch's working set *)
-           match branch_working r b with
-           | Some w => match assoc t (d_schema w) with
-                       | Some cols => ans_eqb a (ARows cols (rows_of t (d_data w)))
-                       | None => is_error a
-                       end
-           | None => is_error a
-           end
-         | _ => match a with ARows _ _ | AHist _ _ => want_commit r v t a | _ => true end   (* refusing is fine; rows must be the right ones *)
-         end
-h    if revdb_denotes r v then want_commit r v t a
-    else match (norm_base r (fst v), snd v) with
-         | (BBranch b, []) =>                         (* dirty branch: `db/branch` is the branch's working set *)
-           match branch_working r b with
-           | Some w => match assoc t (d_schema w) with
-                       | Some cols => ans_eqb a (ARows cols (rows_of t (d_data w)))
-                       | None => is_error a
-                       end
-           | None => is_error a
-           end
-         | _ => match a with ARows _ _ | AHist _ _ => want_commit r v t a | _ => true end   (* refusing is fine; rows must be the right ones *)
-         end
-i    if revdb_denotes r v then want_commit r v t a
-    else match (norm_base r (fst v), snd v) with
-         | (BBranch b, []) =>                         (* dirty branch: `db/branch` is the branch's working set *)
-           match branch_working r b with
-           | Some w => match assoc t (d_schema w) with
-                       | Some cols => ans_eqb a (ARows cols (rows_of t (d_data w)))
-                       | None => is_error a
-                       end
-           | None => is_error a
-           end
-         | _ => match a with ARows _ _ | AHist _ _ => want_commit r v t a | _ => true end   (* refusing is fine; rows must be the right ones *)
-         end
-s    if revdb_denotes r v then want_commit r v t a
-    else match (norm_base r (fst v), snd v) with
-         | (BBranch b, []) =>                         (* dirty branch: `db/branch` is the branch's working set *)
-           match branch_working r b with
-           | Some w => match assoc t (d_schema w) with
-                       | Some cols => ans_eqb a (ARows cols (rows_of t (d_data w)))
-                       | None => is_error a
-                       end
-           | None => is_error a
-           end
-         | _ => match a with ARows _ _ | AHist _ _ => want_commit r v t a | _ => true end   (* refusing is fine; rows must be the right ones *)
-         end
-t    if revdb_denotes r v then want_commit r v t a
-    else match (norm_base r (fst v), snd v) with
-         | (BBranch b, []) =>                         (* dirty branch: `db/branch` is the branch's working set *)
-           match branch_working r b with
-           | Some w => match assoc t (d_schema w) with
-                       | Some cols => ans_eqb a (ARows cols (rows_of t (d_data w)))
-                       | None => is_error a
-                       end
-           | None => is_error a
-           end
-         | _ => match a with ARows _ _ | AHist _ _ => want_commit r v t a | _ => true end   (* refusing is fine; rows must be the right ones *)
-         end
-o    if revdb_denotes r v then want_commit r v t a
-    else match (norm_base r (fst v), snd v) with
-         | (BBranch b, []) =>                         (* dirty branch: `db/branch` is the branch's working set *)
-           match branch_working r b with
-           | Some w => match assoc t (d_schema w) with
-                       | Some cols => ans_eqb a (ARows cols (rows_of t (d_data w)))
-                       | None => is_error a
-                       end
-           | None => is_error a
-           end
-         | _ => match a with ARows _ _ | AHist _ _ => want_commit r v t a | _ => true end   (* refusing is fine; rows must be the right ones *)
-         end
-r    if revdb_denotes r v then want_commit r v t a
-    else match (norm_base r (fst v), snd v) with
-         | (BBranch b, []) =>                         (* dirty branch: `db/branch` is the branch's working set *)
-           match branch_working r b with
-           | Some w => match assoc t (d_schema w) with
-                       | Some cols => ans_eqb a (ARows cols (rows_of t (d_data w)))
-                       | None => is_error a
-                       end
-           | None => is_error a
-           end
-         | _ => match a with ARows _ _ | AHist _ _ => want_commit r v t a | _ => true end   (* refusing is fine; rows must be the right ones *)
-         end
-i    if revdb_denotes r v then want_commit r v t a
-    else match (norm_base r (fst v), snd v) with
-         | (BBranch b, []) =>                         (* dirty branch: `db/branch` is the branch's working set *)
-           match branch_working r b with
-           | Some w => match assoc t (d_schema w) with
-                       | Some cols => ans_eqb a (ARows cols (rows_of t (d_data w)))
-                       | None => is_error a
-                       end
-           | None => is_error a
-           end
-         | _ => match a with ARows _ _ | AHist _ _ => want_commit r v t a | _ => true end   (* refusing is fine; rows must be the right ones *)
-         end
-c    if revdb_denotes r v then want_commit r v t a
-    else match (norm_base r (fst v), snd v) with
-         | (BBranch b, []) =>                         (* dirty branch: `db/branch` is the branch's working set *)
-           match branch_working r b with
-           | Some w => match assoc t (d_schema w) with
-                       | Some cols => ans_eqb a (ARows cols (rows_of t (d_data w)))
-                       | None => is_error a
-                       end
-           | None => is_error a
-           end
-         | _ => match a with ARows _ _ | AHist _ _ => want_commit r v t a | _ => true end   (* refusing is fine; rows must be the right ones *)
-         end
-a    if revdb_denotes r v then want_commit r v t a
-    else match (norm_base r (fst v), snd v) with
-         | (BBranch b, []) =>                         (* dirty branch: `db/branch` is the branch's working set *)
-           match branch_working r b with
-           | Some w => match assoc t (d_schema w) with
-                       | Some cols => ans_eqb a (ARows cols (rows_of t (d_data w)))
-                       | None => is_error a
-                       end
-           | None => is_error a
-           end
-         | _ => match a with ARows _ _ | AHist _ _ => want_commit r v t a | _ => true end   (* refusing is fine; rows must be the right ones *)
-         end
-l    if revdb_denotes r v then want_commit r v t a
-    else match (norm_base r (fst v), snd v) with
-         | (BBranch b, []) =>                         (* dirty branch: `db/branch` is the branch's working set *)
-           match branch_working r b with
-           | Some w => match assoc t (d_schema w) with
-                       | Some cols => ans_eqb a (ARows cols (rows_of t (d_data w)))
-                       | None => is_error a
-                       end
-           | None => is_error a
-           end
-         | _ => match a with ARows _ _ | AHist _ _ => want_commit r v t a | _ => true end   (* refusing is fine; rows must be the right ones *)
-         end
-     if revdb_denotes r v then want_commit r v t a
-    else match (norm_base r (fst v), snd v) with
-         | (BBranch b, []) =>                         (* dirty branch: `db/branch` is the branch's working set *)
-           match branch_working r b with
-           | Some w => match assoc t (d_schema w) with
-                       | Some cols => ans_eqb a (ARows cols (rows_of t (d_data w)))
-                       | None => is_error a
-                       end
-           | None => is_error a
-           end
-         | _ => match a with ARows _ _ | AHist _ _ => want_commit r v t a | _ => true end   (* refusing is fine; rows must be the right ones *)
-         end
-r    if revdb_denotes r v then want_commit r v t a
-    else match (norm_base r (fst v), snd v) with
-         | (BBranch b, []) =>                         (* dirty branch: `db/branch` is the branch's working set *)
-           match branch_working r b with
-           | Some w => match assoc t (d_schema w) with
-                       | Some cols => ans_eqb a (ARows cols (rows_of t (d_data w)))
-                       | None => is_error a
-                       end
-           | None => is_error a
-           end
-         | _ => match a with ARows _ _ | AHist _ _ => want_commit r v t a | _ => true end   (* refusing is fine; rows must be the right ones *)
-         end
-e    if revdb_denotes r v then want_commit r v t a
-    else match (norm_base r (fst v), snd v) with
-         | (BBranch b, []) =>                         (* dirty branch: `db/branch` is the branch's working set *)
-           match branch_working r b with
-           | Some w => match assoc t (d_schema w) with
-                       | Some cols => ans_eqb a (ARows cols (rows_of t (d_data w)))
-                       | None => is_error a
-                       end
-           | None => is_error a
-           end
-         | _ => match a with ARows _ _ | AHist _ _ => want_commit r v t a | _ => true end   (* refusing is fine; rows must be the right ones *)
-         end
-a    if revdb_denotes r v then want_commit r v t a
-    else match (norm_base r (fst v), snd v) with
-         | (BBranch b, []) =>                         (* dirty branch: `db/branch` is the branch's working set *)
-           match branch_working r b with
-           | Some w => match assoc t (d_schema w) with
-                       | Some cols => ans_eqb a (ARows cols (rows_of t (d_data w)))
-                       | None => is_error a
-                       end
-           | None => is_error a
-           end
-         | _ => match a with ARows _ _ | AHist _ _ => want_commit r v t a | _ => true end   (* refusing is fine; rows must be the right ones *)
-         end
-d    if revdb_denotes r v then want_commit r v t a
-    else match (norm_base r (fst v), snd v) with
-         | (BBranch b, []) =>                         (* dirty branch: `db/branch` is the branch's working set *)
-           match branch_working r b with
-           | Some w => match assoc t (d_schema w) with
-                       | Some cols => ans_eqb a (ARows cols (rows_of t (d_data w)))
-                       | None => is_error a
-                       end
-           | None => is_error a
-           end
-         | _ => match a with ARows _ _ | AHist _ _ => want_commit r v t a | _ => true end   (* refusing is fine; rows must be the right ones *)
-         end
-s    if revdb_denotes r v then want_commit r v t a
-    else match (norm_base r (fst v), snd v) with
-         | (BBranch b, []) =>                         (* dirty branch: `db/branch` is the branch's working set *)
-           match branch_working r b with
-           | Some w => match assoc t (d_schema w) with
-                       | Some cols => ans_eqb a (ARows cols (rows_of t (d_data w)))
-                       | None => is_error a
-                       end
-           | None => is_error a
-           end
-         | _ => match a with ARows _ _ | AHist _ _ => want_commit r v t a | _ => true end   (* refusing is fine; rows must be the right ones *)
-         end
-     if revdb_denotes r v then want_commit r v t a
-    else match (norm_base r (fst v), snd v) with
-         | (BBranch b, []) =>                         (* dirty branch: `db/branch` is the branch's working set *)
-           match branch_working r b with
-           | Some w => match assoc t (d_schema w) with
-                       | Some cols => ans_eqb a (ARows cols (rows_of t (d_data w)))
-                       | None => is_error a
-                       end
-           | None => is_error a
-           end
-         | _ => match a with ARows _ _ | AHist _ _ => want_commit r v t a | _ => true end   (* refusing is fine; rows must be the right ones *)
-         end
-i    if revdb_denotes r v then want_commit r v t a
-    else match (norm_base r (fst v), snd v) with
-         | (BBranch b, []) =>                         (* dirty branch: `db/branch` is the branch's working set *)
-           match branch_working r b with
-           | Some w => match assoc t (d_schema w) with
-                       | Some cols => ans_eqb a (ARows cols (rows_of t (d_data w)))
-                       | None => is_error a
-                       end
-           | None => is_error a
-           end
-         | _ => match a with ARows _ _ | AHist _ _ => want_commit r v t a | _ => true end   (* refusing is fine; rows must be the right ones *)
-         end
-s    if revdb_denotes r v then want_commit r v t a
-    else match (norm_base r (fst v), snd v) with
-         | (BBranch b, []) =>                         (* dirty branch: `db/branch` is the branch's working set *)
-           match branch_working r b with
-           | Some w => match assoc t (d_schema w) with
-                       | Some cols => ans_eqb a (ARows cols (rows_of t (d_data w)))
-                       | None => is_error a
-                       end
-           | None => is_error a
-           end
-         | _ => match a with ARows _ _ | AHist _ _ => want_commit r v t a | _ => true end   (* refusing is fine; rows must be the right ones *)
-         end
-s    if revdb_denotes r v then want_commit r v t a
-    else match (norm_base r (fst v), snd v) with
-         | (BBranch b, []) =>                         (* dirty branch: `db/branch` is the branch's working set *)
-           match branch_working r b with
-           | Some w => match assoc t (d_schema w) with
-                       | Some cols => ans_eqb a (ARows cols (rows_of t (d_data w)))
-                       | None => is_error a
-                       end
-           | None => is_error a
-           end
-         | _ => match a with ARows _ _ | AHist _ _ => want_commit r v t a | _ => true end   (* refusing is fine; rows must be the right ones *)
-         end
-u    if revdb_denotes r v then want_commit r v t a
-    else match (norm_base r (fst v), snd v) with
-         | (BBranch b, []) =>                         (* dirty branch: `db/branch` is the branch's working set *)
-           match branch_working r b with
-           | Some w => match assoc t (d_schema w) with
-                       | Some cols => ans_eqb a (ARows cols (rows_of t (d_data w)))
-                       | None => is_error a
-                       end
-           | None => is_error a
-           end
-         | _ => match a with ARows _ _ | AHist _ _ => want_commit r v t a | _ => true end   (* refusing is fine; rows must be the right ones *)
-         end
-e    if revdb_denotes r v then want_commit r v t a
-    else match (norm_base r (fst v), snd v) with
-         | (BBranch b, []) =>                         (* dirty branch: `db/branch` is the branch's working set *)
-           match branch_working r b with
-           | Some w => match assoc t (d_schema w) with
-                       | Some cols => ans_eqb a (ARows cols (rows_of t (d_data w)))
-                       | None => is_error a
-                       end
-           | None => is_error a
-           end
-         | _ => match a with ARows _ _ | AHist _ _ => want_commit r v t a | _ => true end   (* refusing is fine; rows must be the right ones *)
-         end
-d    if revdb_denotes r v then want_commit r v t a
-    else match (norm_base r (fst v), snd v) with
-         | (BBranch b, []) =>                         (* dirty branch: `db/branch` is the branch's working set *)
-           match branch_working r b with
-           | Some w => match assoc t (d_schema w) with
-                       | Some cols => ans_eqb a (ARows cols (rows_of t (d_data w)))
-                       | None => is_error a
-                       end
-           | None => is_error a
-           end
-         | _ => match a with ARows _ _ | AHist _ _ => want_commit r v t a | _ => true end   (* refusing is fine; rows must be the right ones *)
-         end
-     if revdb_denotes r v then want_commit r v t a
-    else match (norm_base r (fst v), snd v) with
-         | (BBranch b, []) =>                         (* dirty branch: `db/branch` is the branch's working set *)
-           match branch_working r b with
-           | Some w => match assoc t (d_schema w) with
-                       | Some cols => ans_eqb a (ARows cols (rows_of t (d_data w)))
-                       | None => is_error a
-                       end
-           | None => is_error a
-           end
-         | _ => match a with ARows _ _ | AHist _ _ => want_commit r v t a | _ => true end   (* refusing is fine; rows must be the right ones *)
-         end
-a    if revdb_denotes r v then want_commit r v t a
-    else match (norm_base r (fst v), snd v) with
-         | (BBranch b, []) =>                         (* dirty branch: `db/branch` is the branch's working set *)
-           match branch_working r b with
-           | Some w => match assoc t (d_schema w) with
-                       | Some cols => ans_eqb a (ARows cols (rows_of t (d_data w)))
-                       | None => is_error a
-                       end
-           | None => is_error a
-           end
-         | _ => match a with ARows _ _ | AHist _ _ => want_commit r v t a | _ => true end   (* refusing is fine; rows must be the right ones *)
-         end
-t    if revdb_denotes r v then want_commit r v t a
-    else match (norm_base r (fst v), snd v) with
-         | (BBranch b, []) =>                         (* dirty branch: `db/branch` is the branch's working set *)
-           match branch_working r b with
-           | Some w => match assoc t (d_schema w) with
-                       | Some cols => ans_eqb a (ARows cols (rows_of t (d_data w)))
-                       | None => is_error a
-                       end
-           | None => is_error a
-           end
-         | _ => match a with ARows _ _ | AHist _ _ => want_commit r v t a | _ => true end   (* refusing is fine; rows must be the right ones *)
-         end
-     if revdb_denotes r v then want_commit r v t a
-    else match (norm_base r (fst v), snd v) with
-         | (BBranch b, []) =>                         (* dirty branch: `db/branch` is the branch's working set *)
-           match branch_working r b with
-           | Some w => match assoc t (d_schema w) with
-                       | Some cols => ans_eqb a (ARows cols (rows_of t (d_data w)))
-                       | None => is_error a
-                       end
-           | None => is_error a
-           end
-         | _ => match a with ARows _ _ | AHist _ _ => want_commit r v t a | _ => true end   (* refusing is fine; rows must be the right ones *)
-         end
-t    if revdb_denotes r v then want_commit r v t a
-    else match (norm_base r (fst v), snd v) with
-         | (BBranch b, []) =>                         (* dirty branch: `db/branch` is the branch's working set *)
-           match branch_working r b with
-           | Some w => match assoc t (d_schema w) with
-                       | Some cols => ans_eqb a (ARows cols (rows_of t (d_data w)))
-                       | None => is_error a
-                       end
-           | None => is_error a
-           end
-         | _ => match a with ARows _ _ | AHist _ _ => want_commit r v t a | _ => true end   (* refusing is fine; rows must be the right ones *)
-         end
-h    if revdb_denotes r v then want_commit r v t a
-    else match (norm_base r (fst v), snd v) with
-         | (BBranch b, []) =>                         (* dirty branch: `db/branch` is the branch's working set *)
-           match branch_working r b with
-           | Some w => match assoc t (d_schema w) with
-                       | Some cols => ans_eqb a (ARows cols (rows_of t (d_data w)))
-                       | None => is_error a
-                       end
-           | None => is_error a
-           end
-         | _ => match a with ARows _ _ | AHist _ _ => want_commit r v t a | _ => true end   (* refusing is fine; rows must be the right ones *)
-         end
-e    if revdb_denotes r v then want_commit r v t a
-    else match (norm_base r (fst v), snd v) with
-         | (BBranch b, []) =>                         (* dirty branch: `db/branch` is the branch's working set *)
-           match branch_working r b with
-           | Some w => match assoc t (d_schema w) with
-                       | Some cols => ans_eqb a (ARows cols (rows_of t (d_data w)))
-                       | None => is_error a
-                       end
-           | None => is_error a
-           end
-         | _ => match a with ARows _ _ | AHist _ _ => want_commit r v t a | _ => true end   (* refusing is fine; rows must be the right ones *)
-         end
-     if revdb_denotes r v then want_commit r v t a
-    else match (norm_base r (fst v), snd v) with
-         | (BBranch b, []) =>                         (* dirty branch: `db/branch` is the branch's working set *)
-           match branch_working r b with
-           | Some w => match assoc t (d_schema w) with
-                       | Some cols => ans_eqb a (ARows cols (rows_of t (d_data w)))
-                       | None => is_error a
-                       end
-           | None => is_error a
-           end
-         | _ => match a with ARows _ _ | AHist _ _ => want_commit r v t a | _ => true end   (* refusing is fine; rows must be the right ones *)
-         end
-e    if revdb_denotes r v then want_commit r v t a
-    else match (norm_base r (fst v), snd v) with
-         | (BBranch b, []) =>                         (* dirty branch: `db/branch` is the branch's working set *)
-           match branch_working r b with
-           | Some w => match assoc t (d_schema w) with
-                       | Some cols => ans_eqb a (ARows cols (rows_of t (d_data w)))
-                       | None => is_error a
-                       end
-           | None => is_error a
-           end
-         | _ => match a with ARows _ _ | AHist _ _ => want_commit r v t a | _ => true end   (* refusing is fine; rows must be the right ones *)
-         end
-n    if revdb_denotes r v then want_commit r v t a
-    else match (norm_base r (fst v), snd v) with
-         | (BBranch b, []) =>                         (* dirty branch: `db/branch` is the branch's working set *)
-           match branch_working r b with
-           | Some w => match assoc t (d_schema w) with
-                       | Some cols => ans_eqb a (ARows cols (rows_of t (d_data w)))
-                       | None => is_error a
-                       end
-           | None => is_error a
-           end
-         | _ => match a with ARows _ _ | AHist _ _ => want_commit r v t a | _ => true end   (* refusing is fine; rows must be the right ones *)
-         end
-d    if revdb_denotes r v then want_commit r v t a
-    else match (norm_base r (fst v), snd v) with
-         | (BBranch b, []) =>                         (* dirty branch: `db/branch` is the branch's working set *)
-           match branch_working r b with
-           | Some w => match assoc t (d_schema w) with
-                       | Some cols => ans_eqb a (ARows cols (rows_of t (d_data w)))
-                       | None => is_error a
-                       end
-           | None => is_error a
-           end
-         | _ => match a with ARows _ _ | AHist _ _ => want_commit r v t a | _ => true end   (* refusing is fine; rows must be the right ones *)
-         end
-.    if revdb_denotes r v then want_commit r v t a
-    else match (norm_base r (fst v), snd v) with
-         | (BBranch b, []) =>                         (* dirty branch: `db/branch` is the branch's working set *)
-           match branch_working r b with
-           | Some w => match assoc t (d_schema w) with
-                       | Some cols => ans_eqb a (ARows cols (rows_of t (d_data w)))
-                       | None => is_error a
-                       end
-           | None => is_error a
-           end
-         | _ => match a with ARows _ _ | AHist _ _ => want_commit r v t a | _ => true end   (* refusing is fine; rows must be the right ones *)
-         end
-     if revdb_denotes r v then want_commit r v t a
-    else match (norm_base r (fst v), snd v) with
-         | (BBranch b, []) =>                         (* dirty branch: `db/branch` is the branch's working set *)
-           match branch_working r b with
-           | Some w => match assoc t (d_schema w) with
-                       | Some cols => ans_eqb a (ARows cols (rows_of t (d_data w)))
-                       | None => is_error a
-                       end
-           | None => is_error a
-           end
-         | _ => match a with ARows _ _ | AHist _ _ => want_commit r v t a | _ => true end   (* refusing is fine; rows must be the right ones *)
-         end
-     if revdb_denotes r v then want_commit r v t a
-    else match (norm_base r (fst v), snd v) with
-         | (BBranch b, []) =>                         (* dirty branch: `db/branch` is the branch's working set *)
-           match branch_working r b with
-           | Some w => match assoc t (d_schema w) with
-                       | Some cols => ans_eqb a (ARows cols (rows_of t (d_data w)))
-                       | None => is_error a
-                       end
-           | None => is_error a
-           end
-         | _ => match a with ARows _ _ | AHist _ _ => want_commit r v t a | _ => true end   (* refusing is fine; rows must be the right ones *)
-         end
-O    if revdb_denotes r v then want_commit r v t a
-    else match (norm_base r (fst v), snd v) with
-         | (BBranch b, []) =>                         (* dirty branch: `db/branch` is the branch's working set *)
-           match branch_working r b with
-           | Some w => match assoc t (d_schema w) with
-                       | Some cols => ans_eqb a (ARows cols (rows_of t (d_data w)))
-                       | None => is_error a
-                       end
-           | None => is_error a
-           end
-         | _ => match a with ARows _ _ | AHist _ _ => want_commit r v t a | _ => true end   (* refusing is fine; rows must be the right ones *)
-         end
-b    if revdb_denotes r v then want_commit r v t a
-    else match (norm_base r (fst v), snd v) with
-         | (BBranch b, []) =>                         (* dirty branch: `db/branch` is the branch's working set *)
-           match branch_working r b with
-           | Some w => match assoc t (d_schema w) with
-                       | Some cols => ans_eqb a (ARows cols (rows_of t (d_data w)))
-                       | None => is_error a
-                       end
-           | None => is_error a
-           end
-         | _ => match a with ARows _ _ | AHist _ _ => want_commit r v t a | _ => true end   (* refusing is fine; rows must be the right ones *)
-         end
-s    if revdb_denotes r v then want_commit r v t a
-    else match (norm_base r (fst v), snd v) with
-         | (BBranch b, []) =>                         (* dirty branch: `db/branch` is the branch's working set *)
-           match branch_working r b with
-           | Some w => match assoc t (d_schema w) with
-                       | Some cols => ans_eqb a (ARows cols (rows_of t (d_data w)))
-                       | None => is_error a
-                       end
-           | None => is_error a
-           end
-         | _ => match a with ARows _ _ | AHist _ _ => want_commit r v t a | _ => true end   (* refusing is fine; rows must be the right ones *)
-         end
-e    if revdb_denotes r v then want_commit r v t a
-    else match (norm_base r (fst v), snd v) with
-         | (BBranch b, []) =>                         (* dirty branch: `db/branch` is the branch's working set *)
-           match branch_working r b with
-           | Some w => match assoc t (d_schema w) with
-                       | Some cols => ans_eqb a (ARows cols (rows_of t (d_data w)))
-                       | None => is_error a
-                       end
-           | None => is_error a
-           end
-         | _ => match a with ARows _ _ | AHist _ _ => want_commit r v t a | _ => true end   (* refusing is fine; rows must be the right ones *)
-         end
-r    if revdb_denotes r v then want_commit r v t a
-    else match (norm_base r (fst v), snd v) with
-         | (BBranch b, []) =>                         (* dirty branch: `db/branch` is the branch's working set *)
-           match branch_working r b with
-           | Some w => match assoc t (d_schema w) with
-                       | Some cols => ans_eqb a (ARows cols (rows_of t (d_data w)))
-                       | None => is_error a
-                       end
-           | None => is_error a
-           end
-         | _ => match a with ARows _ _ | AHist _ _ => want_commit r v t a | _ => true end   (* refusing is fine; rows must be the right ones *)
-         end
-v    if revdb_denotes r v then want_commit r v t a
-    else match (norm_base r (fst v), snd v) with
-         | (BBranch b, []) =>                         (* dirty branch: `db/branch` is the branch's working set *)
-           match branch_working r b with
-           | Some w => match assoc t (d_schema w) with
-                       | Some cols => ans_eqb a (ARows cols (rows_of t (d_data w)))
-                       | None => is_error a
-                       end
-           | None => is_error a
-           end
-         | _ => match a with ARows _ _ | AHist _ _ => want_commit r v t a | _ => true end   (* refusing is fine; rows must be the right ones *)
-         end
-a    if revdb_denotes r v then want_commit r v t a
-    else match (norm_base r (fst v), snd v) with
-         | (BBranch b, []) =>                         (* dirty branch: `db/branch` is the branch's working set *)
-           match branch_working r b with
-           | Some w => match assoc t (d_schema w) with
-                       | Some cols => ans_eqb a (ARows cols (rows_of t (d_data w)))
-                       | None => is_error a
-                       end
-           | None => is_error a
-           end
-         | _ => match a with ARows _ _ | AHist _ _ => want_commit r v t a | _ => true end   (* refusing is fine; rows must be the right ones *)
-         end
-t    if revdb_denotes r v then want_commit r v t a
-    else match (norm_base r (fst v), snd v) with
-         | (BBranch b, []) =>                         (* dirty branch: `db/branch` is the branch's working set *)
-           match branch_working r b with
-           | Some w => match assoc t (d_schema w) with
-                       | Some cols => ans_eqb a (ARows cols (rows_of t (d_data w)))
-                       | None => is_error a
-                       end
-           | None => is_error a
-           end
-         | _ => match a with ARows _ _ | AHist _ _ => want_commit r v t a | _ => true end   (* refusing is fine; rows must be the right ones *)
-         end
-i    if revdb_denotes r v then want_commit r v t a
-    else match (norm_base r (fst v), snd v) with
-         | (BBranch b, []) =>                         (* dirty branch: `db/branch` is the branch's working set *)
-           match branch_working r b with
-           | Some w => match assoc t (d_schema w) with
-                       | Some cols => ans_eqb a (ARows cols (rows_of t (d_data w)))
-                       | None => is_error a
-                       end
-           | None => is_error a
-           end
-         | _ => match a with ARows _ _ | AHist _ _ => want_commit r v t a | _ => true end   (* refusing is fine; rows must be the right ones *)
-         end
-o    if revdb_denotes r v then want_commit r v t a
-    else match (norm_base r (fst v), snd v) with
-         | (BBranch b, []) =>                         (* dirty branch: `db/branch` is the branch's working set *)
-           match branch_working r b with
-           | Some w => match assoc t (d_schema w) with
-                       | Some cols => ans_eqb a (ARows cols (rows_of t (d_data w)))
-                       | None => is_error a
-                       end
-           | None => is_error a
-           end
-         | _ => match a with ARows _ _ | AHist _ _ => want_commit r v t a | _ => true end   (* refusing is fine; rows must be the right ones *)
-         end
-n    if revdb_denotes r v then want_commit r v t a
-    else match (norm_base r (fst v), snd v) with
-         | (BBranch b, []) =>                         (* dirty branch: `db/branch` is the branch's working set *)
-           match branch_working r b with
-           | Some w => match assoc t (d_schema w) with
-                       | Some cols => ans_eqb a (ARows cols (rows_of t (d_data w)))
-                       | None => is_error a
-                       end
-           | None => is_error a
-           end
-         | _ => match a with ARows _ _ | AHist _ _ => want_commit r v t a | _ => true end   (* refusing is fine; rows must be the right ones *)
-         end
-:    if revdb_denotes r v then want_commit r v t a
-    else match (norm_base r (fst v), snd v) with
-         | (BBranch b, []) =>                         (* dirty branch: `db/branch` is the branch's working set *)
-           match branch_working r b with
-           | Some w => match assoc t (d_schema w) with
-                       | Some cols => ans_eqb a (ARows cols (rows_of t (d_data w)))
-                       | None => is_error a
-                       end
-           | None => is_error a
-           end
-         | _ => match a with ARows _ _ | AHist _ _ => want_commit r v t a | _ => true end   (* refusing is fine; rows must be the right ones *)
-         end
-     if revdb_denotes r v then want_commit r v t a
-    else match (norm_base r (fst v), snd v) with
-         | (BBranch b, []) =>                         (* dirty branch: `db/branch` is the branch's working set *)
-           match branch_working r b with
-           | Some w => match assoc t (d_schema w) with
-                       | Some cols => ans_eqb a (ARows cols (rows_of t (d_data w)))
-                       | None => is_error a
-                       end
-           | None => is_error a
-           end
-         | _ => match a with ARows _ _ | AHist _ _ => want_commit r v t a | _ => true end   (* refusing is fine; rows must be the right ones *)
-         end
-t    if revdb_denotes r v then want_commit r v t a
-    else match (norm_base r (fst v), snd v) with
-         | (BBranch b, []) =>                         (* dirty branch: `db/branch` is the branch's working set *)
-           match branch_working r b with
-           | Some w => match assoc t (d_schema w) with
-                       | Some cols => ans_eqb a (ARows cols (rows_of t (d_data w)))
-                       | None => is_error a
-                       end
-           | None => is_error a
-           end
-         | _ => match a with ARows _ _ | AHist _ _ => want_commit r v t a | _ => true end   (* refusing is fine; rows must be the right ones *)
-         end
-h    if revdb_denotes r v then want_commit r v t a
-    else match (norm_base r (fst v), snd v) with
-         | (BBranch b, []) =>                         (* dirty branch: `db/branch` is the branch's working set *)
-           match branch_working r b with
-           | Some w => match assoc t (d_schema w) with
-                       | Some cols => ans_eqb a (ARows cols (rows_of t (d_data w)))
-                       | None => is_error a
-                       end
-           | None => is_error a
-           end
-         | _ => match a with ARows _ _ | AHist _ _ => want_commit r v t a | _ => true end   (* refusing is fine; rows must be the right ones *)
-         end
-e    if revdb_denotes r v then want_commit r v t a
-    else match (norm_base r (fst v), snd v) with
-         | (BBranch b, []) =>                         (* dirty branch: `db/branch` is the branch's working set *)
-           match branch_working r b with
-           | Some w => match assoc t (d_schema w) with
-                       | Some cols => ans_eqb a (ARows cols (rows_of t (d_data w)))
-                       | None => is_error a
-                       end
-           | None => is_error a
-           end
-         | _ => match a with ARows _ _ | AHist _ _ => want_commit r v t a | _ => true end   (* refusing is fine; rows must be the right ones *)
-         end
-     if revdb_denotes r v then want_commit r v t a
-    else match (norm_base r (fst v), snd v) with
-         | (BBranch b, []) =>                         (* dirty branch: `db/branch` is the branch's working set *)
-           match branch_working r b with
-           | Some w => match assoc t (d_schema w) with
-                       | Some cols => ans_eqb a (ARows cols (rows_of t (d_data w)))
-                       | None => is_error a
-                       end
-           | None => is_error a
-           end
-         | _ => match a with ARows _ _ | AHist _ _ => want_commit r v t a | _ => true end   (* refusing is fine; rows must be the right ones *)
-         end
-a    if revdb_denotes r v then want_commit r v t a
-    else match (norm_base r (fst v), snd v) with
-         | (BBranch b, []) =>                         (* dirty branch: `db/branch` is the branch's working set *)
-           match branch_working r b with
-           | Some w => match assoc t (d_schema w) with
-                       | Some cols => ans_eqb a (ARows cols (rows_of t (d_data w)))
-                       | None => is_error a
-                       end
-           | None => is_error a
-           end
-         | _ => match a with ARows _ _ | AHist _ _ => want_commit r v t a | _ => true end   (* refusing is fine; rows must be the right ones *)
-         end
-n    if revdb_denotes r v then want_commit r v t a
-    else match (norm_base r (fst v), snd v) with
-         | (BBranch b, []) =>                         (* dirty branch: `db/branch` is the branch's working set *)
-           match branch_working r b with
-           | Some w => match assoc t (d_schema w) with
-                       | Some cols => ans_eqb a (ARows cols (rows_of t (d_data w)))
-                       | None => is_error a
-                       end
-           | None => is_error a
-           end
-         | _ => match a with ARows _ _ | AHist _ _ => want_commit r v t a | _ => true end   (* refusing is fine; rows must be the right ones *)
-         end
-s    if revdb_denotes r v then want_commit r v t a
-    else match (norm_base r (fst v), snd v) with
-         | (BBranch b, []) =>                         (* dirty branch: `db/branch` is the branch's working set *)
-           match branch_working r b with
-           | Some w => match assoc t (d_schema w) with
-                       | Some cols => ans_eqb a (ARows cols (rows_of t (d_data w)))
-                       | None => is_error a
-                       end
-           | None => is_error a
-           end
-         | _ => match a with ARows _ _ | AHist _ _ => want_commit r v t a | _ => true end   (* refusing is fine; rows must be the right ones *)
-         end
-w    if revdb_denotes r v then want_commit r v t a
-    else match (norm_base r (fst v), snd v) with
-         | (BBranch b, []) =>                         (* dirty branch: `db/branch` is the branch's working set *)
-           match branch_working r b with
-           | Some w => match assoc t (d_schema w) with
-                       | Some cols => ans_eqb a (ARows cols (rows_of t (d_data w)))
-                       | None => is_error a
-                       end
-           | None => is_error a
-           end
-         | _ => match a with ARows _ _ | AHist _ _ => want_commit r v t a | _ => true end   (* refusing is fine; rows must be the right ones *)
-         end
-e    if revdb_denotes r v then want_commit r v t a
-    else match (norm_base r (fst v), snd v) with
-         | (BBranch b, []) =>                         (* dirty branch: `db/branch` is the branch's working set *)
-           match branch_working r b with
-           | Some w => match assoc t (d_schema w) with
-                       | Some cols => ans_eqb a (ARows cols (rows_of t (d_data w)))
-                       | None => is_error a
-                       end
-           | None => is_error a
-           end
-         | _ => match a with ARows _ _ | AHist _ _ => want_commit r v t a | _ => true end   (* refusing is fine; rows must be the right ones *)
-         end
-r    if revdb_denotes r v then want_commit r v t a
-    else match (norm_base r (fst v), snd v) with
-         | (BBranch b, []) =>                         (* dirty branch: `db/branch` is the branch's working set *)
-           match branch_working r b with
-           | Some w => match assoc t (d_schema w) with
-                       | Some cols => ans_eqb a (ARows cols (rows_of t (d_data w)))
-                       | None => is_error a
-                       end
-           | None => is_error a
-           end
-         | _ => match a with ARows _ _ | AHist _ _ => want_commit r v t a | _ => true end   (* refusing is fine; rows must be the right ones *)
-         end
-s    if revdb_denotes r v then want_commit r v t a
-    else match (norm_base r (fst v), snd v) with
-         | (BBranch b, []) =>                         (* dirty branch: `db/branch` is the branch's working set *)
-           match branch_working r b with
-           | Some w => match assoc t (d_schema w) with
-                       | Some cols => ans_eqb a (ARows cols (rows_of t (d_data w)))
-                       | None => is_error a
-                       end
-           | None => is_error a
-           end
-         | _ => match a with ARows _ _ | AHist _ _ => want_commit r v t a | _ => true end   (* refusing is fine; rows must be the right ones *)
-         end
-.    if revdb_denotes r v then want_commit r v t a
-    else match (norm_base r (fst v), snd v) with
-         | (BBranch b, []) =>                         (* dirty branch: `db/branch` is the branch's working set *)
-           match branch_working r b with
-           | Some w => match assoc t (d_schema w) with
-                       | Some cols => ans_eqb a (ARows cols (rows_of t (d_data w)))
-                       | None => is_error a
-                       end
-           | None => is_error a
-           end
-         | _ => match a with ARows _ _ | AHist _ _ => want_commit r v t a | _ => true end   (* refusing is fine; rows must be the right ones *)
-         end
-     if revdb_denotes r v then want_commit r v t a
-    else match (norm_base r (fst v), snd v) with
-         | (BBranch b, []) =>                         (* dirty branch: `db/branch` is the branch's working set *)
-           match branch_working r b with
-           | Some w => match assoc t (d_schema w) with
-                       | Some cols => ans_eqb a (ARows cols (rows_of t (d_data w)))
-                       | None => is_error a
-                       end
-           | None => is_error a
-           end
-         | _ => match a with ARows _ _ | AHist _ _ => want_commit r v t a | _ => true end   (* refusing is fine; rows must be the right ones *)
-         end
-     if revdb_denotes r v then want_commit r v t a
-    else match (norm_base r (fst v), snd v) with
-         | (BBranch b, []) =>                         (* dirty branch: `db/branch` is the branch's working set *)
-           match branch_working r b with
-           | Some w => match assoc t (d_schema w) with
-                       | Some cols => ans_eqb a (ARows cols (rows_of t (d_data w)))
-                       | None => is_error a
-                       end
-           | None => is_error a
-           end
-         | _ => match a with ARows _ _ | AHist _ _ => want_commit r v t a | _ => true end   (* refusing is fine; rows must be the right ones *)
-         end
-T    if revdb_denotes r v then want_commit r v t a
-    else match (norm_base r (fst v), snd v) with
-         | (BBranch b, []) =>                         (* dirty branch: `db/branch` is the branch's working set *)
-           match branch_working r b with
-           | Some w => match assoc t (d_schema w) with
-                       | Some cols => ans_eqb a (ARows cols (rows_of t (d_data w)))
-                       | None => is_error a
-                       end
-           | None => is_error a
-           end
-         | _ => match a with ARows _ _ | AHist _ _ => want_commit r v t a | _ => true end   (* refusing is fine; rows must be the right ones *)
-         end
-h    if revdb_denotes r v then want_commit r v t a
-    else match (norm_base r (fst v), snd v) with
-         | (BBranch b, []) =>                         (* dirty branch: `db/branch` is the branch's working set *)
-           match branch_working r b with
-           | Some w => match assoc t (d_schema w) with
-                       | Some cols => ans_eqb a (ARows cols (rows_of t (d_data w)))
-                       | None => is_error a
-                       end
-           | None => is_error a
-           end
-         | _ => match a with ARows _ _ | AHist _ _ => want_commit r v t a | _ => true end   (* refusing is fine; rows must be the right ones *)
-         end
-e    if revdb_denotes r v then want_commit r v t a
-    else match (norm_base r (fst v), snd v) with
-         | (BBranch b, []) =>                         (* dirty branch: `db/branch` is the branch's working set *)
-           match branch_working r b with
-           | Some w => match assoc t (d_schema w) with
-                       | Some cols => ans_eqb a (ARows cols (rows_of t (d_data w)))
-                       | None => is_error a
-                       end
-           | None => is_error a
-           end
-         | _ => match a with ARows _ _ | AHist _ _ => want_commit r v t a | _ => true end   (* refusing is fine; rows must be the right ones *)
-         end
-
-    if revdb_denotes r v then want_commit r v t a
-    else match (norm_base r (fst v), snd v) with
-         | (BBranch b, []) =>                         (* dirty branch: `db/branch` is the branch's working set *)
-           match branch_working r b with
-           | Some w => match assoc t (d_schema w) with
-                       | Some cols => ans_eqb a (ARows cols (rows_of t (d_data w)))
-                       | None => is_error a
-                       end
-           | None => is_error a
-           end
-         | _ => match a with ARows _ _ | AHist _ _ => want_commit r v t a | _ => true end   (* refusing is fine; rows must be the right ones *)
-         end
-     if revdb_denotes r v then want_commit r v t a
-    else match (norm_base r (fst v), snd v) with
-         | (BBranch b, []) =>                         (* dirty branch: `db/branch` is the branch's working set *)
-           match branch_working r b with
-           | Some w => match assoc t (d_schema w) with
-                       | Some cols => ans_eqb a (ARows cols (rows_of t (d_data w)))
-                       | None => is_error a
-                       end
-           | None => is_error a
-           end
-         | _ => match a with ARows _ _ | AHist _ _ => want_commit r v t a | _ => true end   (* refusing is fine; rows must be the right ones *)
-         end
-     if revdb_denotes r v then want_commit r v t a
-    else match (norm_base r (fst v), snd v) with
-         | (BBranch b, []) =>                         (* dirty branch: `db/branch` is the branch's working set *)
-           match branch_working r b with
-           | Some w => match assoc t (d_schema w) with
-                       | Some cols => ans_eqb a (ARows cols (rows_of t (d_data w)))
-                       | None => is_error a
-                       end
-           | None => is_error a
-           end
-         | _ => match a with ARows _ _ | AHist _ _ => want_commit r v t a | _ => true end   (* refusing is fine; rows must be the right ones *)
-         end
-     if revdb_denotes r v then want_commit r v t a
-    else match (norm_base r (fst v), snd v) with
-         | (BBranch b, []) =>                         (* dirty branch: `db/branch` is the branch's working set *)
-           match branch_working r b with
-           | Some w => match assoc t (d_schema w) with
-                       | Some cols => ans_eqb a (ARows cols (rows_of t (d_data w)))
-                       | None => is_error a
-                       end
-           | None => is_error a
-           end
-         | _ => match a with ARows _ _ | AHist _ _ => want_commit r v t a | _ => true end   (* refusing is fine; rows must be the right ones *)
-         end
-m    if revdb_denotes r v then want_commit r v t a
-    else match (norm_base r (fst v), snd v) with
-         | (BBranch b, []) =>                         (* dirty branch: `db/branch` is the branch's working set *)
-           match branch_working r b with
-           | Some w => match assoc t (d_schema w) with
-                       | Some cols => ans_eqb a (ARows cols (rows_of t (d_data w)))
-                       | None => is_error a
-                       end
-           | None => is_error a
-           end
-         | _ => match a with ARows _ _ | AHist _ _ => want_commit r v t a | _ => true end   (* refusing is fine; rows must be the right ones *)
-         end
-o    if revdb_denotes r v then want_commit r v t a
-    else match (norm_base r (fst v), snd v) with
-         | (BBranch b, []) =>                         (* dirty branch: `db/branch` is the branch's working set *)
-           match branch_working r b with
-           | Some w => match assoc t (d_schema w) with
-                       | Some cols => ans_eqb a (ARows cols (rows_of t (d_data w)))
-                       | None => is_error a
-                       end
-           | None => is_error a
-           end
-         | _ => match a with ARows _ _ | AHist _ _ => want_commit r v t a | _ => true end   (* refusing is fine; rows must be the right ones *)
-         end
-d    if revdb_denotes r v then want_commit r v t a
-    else match (norm_base r (fst v), snd v) with
-         | (BBranch b, []) =>                         (* dirty branch: `db/branch` is the branch's working set *)
-           match branch_working r b with
-           | Some w => match assoc t (d_schema w) with
-                       | Some cols => ans_eqb a (ARows cols (rows_of t (d_data w)))
-                       | None => is_error a
-                       end
-           | None => is_error a
-           end
-         | _ => match a with ARows _ _ | AHist _ _ => want_commit r v t a | _ => true end   (* refusing is fine; rows must be the right ones *)
-         end
-e    if revdb_denotes r v then want_commit r v t a
-    else match (norm_base r (fst v), snd v) with
-         | (BBranch b, []) =>                         (* dirty branch: `db/branch` is the branch's working set *)
-           match branch_working r b with
-           | Some w => match assoc t (d_schema w) with
-                       | Some cols => ans_eqb a (ARows cols (rows_of t (d_data w)))
-                       | None => is_error a
-                       end
-           | None => is_error a
-           end
-         | _ => match a with ARows _ _ | AHist _ _ => want_commit r v t a | _ => true end   (* refusing is fine; rows must be the right ones *)
-         end
-l    if revdb_denotes r v then want_commit r v t a
-    else match (norm_base r (fst v), snd v) with
-         | (BBranch b, []) =>                         (* dirty branch: `db/branch` is the branch's working set *)
-           match branch_working r b with
-           | Some w => match assoc t (d_schema w) with
-                       | Some cols => ans_eqb a (ARows cols (rows_of t (d_data w)))
-                       | None => is_error a
-                       end
-           | None => is_error a
-           end
-         | _ => match a with ARows _ _ | AHist _ _ => want_commit r v t a | _ => true end   (* refusing is fine; rows must be the right ones *)
-         end
-     if revdb_denotes r v then want_commit r v t a
-    else match (norm_base r (fst v), snd v) with
-         | (BBranch b, []) =>                         (* dirty branch: `db/branch` is the branch's working set *)
-           match branch_working r b with
-           | Some w => match assoc t (d_schema w) with
-                       | Some cols => ans_eqb a (ARows cols (rows_of t (d_data w)))
-                       | None => is_error a
-                       end
-           | None => is_error a
-           end
-         | _ => match a with ARows _ _ | AHist _ _ => want_commit r v t a | _ => true end   (* refusing is fine; rows must be the right ones *)
-         end
-a    if revdb_denotes r v then want_commit r v t a
-    else match (norm_base r (fst v), snd v) with
-         | (BBranch b, []) =>                         (* dirty branch: `db/branch` is the branch's working set *)
-           match branch_working r b with
-           | Some w => match assoc t (d_schema w) with
-                       | Some cols => ans_eqb a (ARows cols (rows_of t (d_data w)))
-                       | None => is_error a
-                       end
-           | None => is_error a
-           end
-         | _ => match a with ARows _ _ | AHist _ _ => want_commit r v t a | _ => true end   (* refusing is fine; rows must be the right ones *)
-         end
-n    if revdb_denotes r v then want_commit r v t a
-    else match (norm_base r (fst v), snd v) with
-         | (BBranch b, []) =>                         (* dirty branch: `db/branch` is the branch's working set *)
-           match branch_working r b with
-           | Some w => match assoc t (d_schema w) with
-                       | Some cols => ans_eqb a (ARows cols (rows_of t (d_data w)))
-                       | None => is_error a
-                       end
-           | None => is_error a
-           end
-         | _ => match a with ARows _ _ | AHist _ _ => want_commit r v t a | _ => true end   (* refusing is fine; rows must be the right ones *)
-         end
-s    if revdb_denotes r v then want_commit r v t a
-    else match (norm_base r (fst v), snd v) with
-         | (BBranch b, []) =>                         (* dirty branch: `db/branch` is the branch's working set *)
-           match branch_working r b with
-           | Some w => match assoc t (d_schema w) with
-                       | Some cols => ans_eqb a (ARows cols (rows_of t (d_data w)))
-                       | None => is_error a
-                       end
-           | None => is_error a
-           end
-         | _ => match a with ARows _ _ | AHist _ _ => want_commit r v t a | _ => true end   (* refusing is fine; rows must be the right ones *)
-         end
-w    if revdb_denotes r v then want_commit r v t a
-    else match (norm_base r (fst v), snd v) with
-         | (BBranch b, []) =>                         (* dirty branch: `db/branch` is the branch's working set *)
-           match branch_working r b with
-           | Some w => match assoc t (d_schema w) with
-                       | Some cols => ans_eqb a (ARows cols (rows_of t (d_data w)))
-                       | None => is_error a
-                       end
-           | None => is_error a
-           end
-         | _ => match a with ARows _ _ | AHist _ _ => want_commit r v t a | _ => true end   (* refusing is fine; rows must be the right ones *)
-         end
-e    if revdb_denotes r v then want_commit r v t a
-    else match (norm_base r (fst v), snd v) with
-         | (BBranch b, []) =>                         (* dirty branch: `db/branch` is the branch's working set *)
-           match branch_working r b with
-           | Some w => match assoc t (d_schema w) with
-                       | Some cols => ans_eqb a (ARows cols (rows_of t (d_data w)))
-                       | None => is_error a
-                       end
-           | None => is_error a
-           end
-         | _ => match a with ARows _ _ | AHist _ _ => want_commit r v t a | _ => true end   (* refusing is fine; rows must be the right ones *)
-         end
-r    if revdb_denotes r v then want_commit r v t a
-    else match (norm_base r (fst v), snd v) with
-         | (BBranch b, []) =>                         (* dirty branch: `db/branch` is the branch's working set *)
-           match branch_working r b with
-           | Some w => match assoc t (d_schema w) with
-                       | Some cols => ans_eqb a (ARows cols (rows_of t (d_data w)))
-                       | None => is_error a
-                       end
-           | None => is_error a
-           end
-         | _ => match a with ARows _ _ | AHist _ _ => want_commit r v t a | _ => true end   (* refusing is fine; rows must be the right ones *)
-         end
-s    if revdb_denotes r v then want_commit r v t a
-    else match (norm_base r (fst v), snd v) with
-         | (BBranch b, []) =>                         (* dirty branch: `db/branch` is the branch's working set *)
-           match branch_working r b with
-           | Some w => match assoc t (d_schema w) with
-                       | Some cols => ans_eqb a (ARows cols (rows_of t (d_data w)))
-                       | None => is_error a
-                       end
-           | None => is_error a
-           end
-         | _ => match a with ARows _ _ | AHist _ _ => want_commit r v t a | _ => true end   (* refusing is fine; rows must be the right ones *)
-         end
-     if revdb_denotes r v then want_commit r v t a
-    else match (norm_base r (fst v), snd v) with
-         | (BBranch b, []) =>                         (* dirty branch: `db/branch` is the branch's working set *)
-           match branch_working r b with
-           | Some w => match assoc t (d_schema w) with
-                       | Some cols => ans_eqb a (ARows cols (rows_of t (d_data w)))
-                       | None => is_error a
-                       end
-           | None => is_error a
-           end
-         | _ => match a with ARows _ _ | AHist _ _ => want_commit r v t a | _ => true end   (* refusing is fine; rows must be the right ones *)
-         end
-e    if revdb_denotes r v then want_commit r v t a
-    else match (norm_base r (fst v), snd v) with
-         | (BBranch b, []) =>                         (* dirty branch: `db/branch` is the branch's working set *)
-           match branch_working r b with
-           | Some w => match assoc t (d_schema w) with
-                       | Some cols => ans_eqb a (ARows cols (rows_of t (d_data w)))
-                       | None => is_error a
-                       end
-           | None => is_error a
-           end
-         | _ => match a with ARows _ _ | AHist _ _ => want_commit r v t a | _ => true end   (* refusing is fine; rows must be the right ones *)
-         end
-v    if revdb_denotes r v then want_commit r v t a
-    else match (norm_base r (fst v), snd v) with
-         | (BBranch b, []) =>                         (* dirty branch: `db/branch` is the branch's working set *)
-           match branch_working r b with
-           | Some w => match assoc t (d_schema w) with
-                       | Some cols => ans_eqb a (ARows cols (rows_of t (d_data w)))
-                       | None => is_error a
-                       end
-           | None => is_error a
-           end
-         | _ => match a with ARows _ _ | AHist _ _ => want_commit r v t a | _ => true end   (* refusing is fine; rows must be the right ones *)
-         end
-e    if revdb_denotes r v then want_commit r v t a
-    else match (norm_base r (fst v), snd v) with
-         | (BBranch b, []) =>                         (* dirty branch: `db/branch` is the branch's working set *)
-           match branch_working r b with
-           | Some w => match assoc t (d_schema w) with
-                       | Some cols => ans_eqb a (ARows cols (rows_of t (d_data w)))
-                       | None => is_error a
-                       end
-           | None => is_error a
-           end
-         | _ => match a with ARows _ _ | AHist _ _ => want_commit r v t a | _ => true end   (* refusing is fine; rows must be the right ones *)
-         end
-r    if revdb_denotes r v then want_commit r v t a
-    else match (norm_base r (fst v), snd v) with
-         | (BBranch b, []) =>                         (* dirty branch: `db/branch` is the branch's working set *)
-           match branch_working r b with
-           | Some w => match assoc t (d_schema w) with
-                       | Some cols => ans_eqb a (ARows cols (rows_of t (d_data w)))
-                       | None => is_error a
-                       end
-           | None => is_error a
-           end
-         | _ => match a with ARows _ _ | AHist _ _ => want_commit r v t a | _ => true end   (* refusing is fine; rows must be the right ones *)
-         end
-y    if revdb_denotes r v then want_commit r v t a
-    else match (norm_base r (fst v), snd v) with
-         | (BBranch b, []) =>                         (* dirty branch: `db/branch` is the branch's working set *)
-           match branch_working r b with
-           | Some w => match assoc t (d_schema w) with
-                       | Some cols => ans_eqb a (ARows cols (rows_of t (d_data w)))
-                       | None => is_error a
-                       end
-           | None => is_error a
-           end
-         | _ => match a with ARows _ _ | AHist _ _ => want_commit r v t a | _ => true end   (* refusing is fine; rows must be the right ones *)
-         end
-     if revdb_denotes r v then want_commit r v t a
-    else match (norm_base r (fst v), snd v) with
-         | (BBranch b, []) =>                         (* dirty branch: `db/branch` is the branch's working set *)
-           match branch_working r b with
-           | Some w => match assoc t (d_schema w) with
-                       | Some cols => ans_eqb a (ARows cols (rows_of t (d_data w)))
-                       | None => is_error a
-                       end
-           | None => is_error a
-           end
-         | _ => match a with ARows _ _ | AHist _ _ => want_commit r v t a | _ => true end   (* refusing is fine; rows must be the right ones *)
-         end
-r    if revdb_denotes r v then want_commit r v t a
-    else match (norm_base r (fst v), snd v) with
-         | (BBranch b, []) =>                         (* dirty branch: `db/branch` is the branch's working set *)
-           match branch_working r b with
-           | Some w => match assoc t (d_schema w) with
-                       | Some cols => ans_eqb a (ARows cols (rows_of t (d_data w)))
-                       | None => is_error a
-                       end
-           | None => is_error a
-           end
-         | _ => match a with ARows _ _ | AHist _ _ => want_commit r v t a | _ => true end   (* refusing is fine; rows must be the right ones *)
-         end
-e    if revdb_denotes r v then want_commit r v t a
-    else match (norm_base r (fst v), snd v) with
-         | (BBranch b, []) =>                         (* dirty branch: `db/branch` is the branch's working set *)
-           match branch_working r b with
-           | Some w => match assoc t (d_schema w) with
-                       | Some cols => ans_eqb a (ARows cols (rows_of t (d_data w)))
-                       | None => is_error a
-                       end
-           | None => is_error a
-           end
-         | _ => match a with ARows _ _ | AHist _ _ => want_commit r v t a | _ => true end   (* refusing is fine; rows must be the right ones *)
-         end
-a    if revdb_denotes r v then want_commit r v t a
-    else match (norm_base r (fst v), snd v) with
-         | (BBranch b, []) =>                         (* dirty branch: `db/branch` is the branch's working set *)
-           match branch_working r b with
-           | Some w => match assoc t (d_schema w) with
-                       | Some cols => ans_eqb a (ARows cols (rows_of t (d_data w)))
-                       | None => is_error a
-                       end
-           | None => is_error a
-           end
-         | _ => match a with ARows _ _ | AHist _ _ => want_commit r v t a | _ => true end   (* refusing is fine; rows must be the right ones *)
-         end
-d    if revdb_denotes r v then want_commit r v t a
-    else match (norm_base r (fst v), snd v) with
-         | (BBranch b, []) =>                         (* dirty branch: `db/branch` is the branch's working set *)
-           match branch_working r b with
-           | Some w => match assoc t (d_schema w) with
-                       | Some cols => ans_eqb a (ARows cols (rows_of t (d_data w)))
-                       | None => is_error a
-                       end
-           | None => is_error a
-           end
-         | _ => match a with ARows _ _ | AHist _ _ => want_commit r v t a | _ => true end   (* refusing is fine; rows must be the right ones *)
-         end
-     if revdb_denotes r v then want_commit r v t a
-    else match (norm_base r (fst v), snd v) with
-         | (BBranch b, []) =>                         (* dirty branch: `db/branch` is the branch's working set *)
-           match branch_working r b with
-           | Some w => match assoc t (d_schema w) with
-                       | Some cols => ans_eqb a (ARows cols (rows_of t (d_data w)))
-                       | None => is_error a
-                       end
-           | None => is_error a
-           end
-         | _ => match a with ARows _ _ | AHist _ _ => want_commit r v t a | _ => true end   (* refusing is fine; rows must be the right ones *)
-         end
-f    if revdb_denotes r v then want_commit r v t a
-    else match (norm_base r (fst v), snd v) with
-         | (BBranch b, []) =>                         (* dirty branch: `db/branch` is the branch's working set *)
-           match branch_working r b with
-           | Some w => match assoc t (d_schema w) with
-                       | Some cols => ans_eqb a (ARows cols (rows_of t (d_data w)))
-                       | None => is_error a
-                       end
-           | None => is_error a
-           end
-         | _ => match a with ARows _ _ | AHist _ _ => want_commit r v t a | _ => true end   (* refusing is fine; rows must be the right ones *)
-         end
-r    if revdb_denotes r v then want_commit r v t a
-    else match (norm_base r (fst v), snd v) with
-         | (BBranch b, []) =>                         (* dirty branch: `db/branch` is the branch's working set *)
-           match branch_working r b with
-           | Some w => match assoc t (d_schema w) with
-                       | Some cols => ans_eqb a (ARows cols (rows_of t (d_data w)))
-                       | None => is_error a
-                       end
-           | None => is_error a
-           end
-         | _ => match a with ARows _ _ | AHist _ _ => want_commit r v t a | _ => true end   (* refusing is fine; rows must be the right ones *)
-         end
-o    if revdb_denotes r v then want_commit r v t a
-    else match (norm_base r (fst v), snd v) with
-         | (BBranch b, []) =>                         (* dirty branch: `db/branch` is the branch's working set *)
-           match branch_working r b with
-           | Some w => match assoc t (d_schema w) with
-                       | Some cols => ans_eqb a (ARows cols (rows_of t (d_data w)))
-                       | None => is_error a
-                       end
-           | None => is_error a
-           end
-         | _ => match a with ARows _ _ | AHist _ _ => want_commit r v t a | _ => true end   (* refusing is fine; rows must be the right ones *)
-         end
-m    if revdb_denotes r v then want_commit r v t a
-    else match (norm_base r (fst v), snd v) with
-         | (BBranch b, []) =>                         (* dirty branch: `db/branch` is the branch's working set *)
-           match branch_working r b with
-           | Some w => match assoc t (d_schema w) with
-                       | Some cols => ans_eqb a (ARows cols (rows_of t (d_data w)))
-                       | None => is_error a
-                       end
-           | None => is_error a
-           end
-         | _ => match a with ARows _ _ | AHist _ _ => want_commit r v t a | _ => true end   (* refusing is fine; rows must be the right ones *)
-         end
-     if revdb_denotes r v then want_commit r v t a
-    else match (norm_base r (fst v), snd v) with
-         | (BBranch b, []) =>                         (* dirty branch: `db/branch` is the branch's working set *)
-           match branch_working r b with
-           | Some w => match assoc t (d_schema w) with
-                       | Some cols => ans_eqb a (ARows cols (rows_of t (d_data w)))
-                       | None => is_error a
-                       end
-           | None => is_error a
-           end
-         | _ => match a with ARows _ _ | AHist _ _ => want_commit r v t a | _ => true end   (* refusing is fine; rows must be the right ones *)
-         end
-t    if revdb_denotes r v then want_commit r v t a
-    else match (norm_base r (fst v), snd v) with
-         | (BBranch b, []) =>                         (* dirty branch: `db/branch` is the branch's working set *)
-           match branch_working r b with
-           | Some w => match assoc t (d_schema w) with
-                       | Some cols => ans_eqb a (ARows cols (rows_of t (d_data w)))
-                       | None => is_error a
-                       end
-           | None => is_error a
-           end
-         | _ => match a with ARows _ _ | AHist _ _ => want_commit r v t a | _ => true end   (* refusing is fine; rows must be the right ones *)
-         end
-h    if revdb_denotes r v then want_commit r v t a
-    else match (norm_base r (fst v), snd v) with
-         | (BBranch b, []) =>                         (* dirty branch: `db/branch` is the branch's working set *)
-           match branch_working r b with
-           | Some w => match assoc t (d_schema w) with
-                       | Some cols => ans_eqb a (ARows cols (rows_of t (d_data w)))
-                       | None => is_error a
-                       end
-           | None => is_error a
-           end
-         | _ => match a with ARows _ _ | AHist _ _ => want_commit r v t a | _ => true end   (* refusing is fine; rows must be the right ones *)
-         end
-e    if revdb_denotes r v then want_commit r v t a
-    else match (norm_base r (fst v), snd v) with
-         | (BBranch b, []) =>                         (* dirty branch: `db/branch` is the branch's working set *)
-           match branch_working r b with
-           | Some w => match assoc t (d_schema w) with
-                       | Some cols => ans_eqb a (ARows cols (rows_of t (d_data w)))
-                       | None => is_error a
-                       end
-           | None => is_error a
-           end
-         | _ => match a with ARows _ _ | AHist _ _ => want_commit r v t a | _ => true end   (* refusing is fine; rows must be the right ones *)
-         end
-     if revdb_denotes r v then want_commit r v t a
-    else match (norm_base r (fst v), snd v) with
-         | (BBranch b, []) =>                         (* dirty branch: `db/branch` is the branch's working set *)
-           match branch_working r b with
-           | Some w => match assoc t (d_schema w) with
-                       | Some cols => ans_eqb a (ARows cols (rows_of t (d_data w)))
-                       | None => is_error a
-                       end
-           | None => is_error a
-           end
-         | _ => match a with ARows _ _ | AHist _ _ => want_commit r v t a | _ => true end   (* refusing is fine; rows must be the right ones *)
-         end
-r    if revdb_denotes r v then want_commit r v t a
-    else match (norm_base r (fst v), snd v) with
-         | (BBranch b, []) =>                         (* dirty branch: `db/branch` is the branch's working set *)
-           match branch_working r b with
-           | Some w => match assoc t (d_schema w) with
-                       | Some cols => ans_eqb a (ARows cols (rows_of t (d_data w)))
-                       | None => is_error a
-                       end
-           | None => is_error a
-           end
-         | _ => match a with ARows _ _ | AHist _ _ => want_commit r v t a | _ => true end   (* refusing is fine; rows must be the right ones *)
-         end
-e    if revdb_denotes r v then want_commit r v t a
-    else match (norm_base r (fst v), snd v) with
-         | (BBranch b, []) =>                         (* dirty branch: `db/branch` is the branch's working set *)
-           match branch_working r b with
-           | Some w => match assoc t (d_schema w) with
-                       | Some cols => ans_eqb a (ARows cols (rows_of t (d_data w)))
-                       | None => is_error a
-                       end
-           | None => is_error a
-           end
-         | _ => match a with ARows _ _ | AHist _ _ => want_commit r v t a | _ => true end   (* refusing is fine; rows must be the right ones *)
-         end
-c    if revdb_denotes r v then want_commit r v t a
-    else match (norm_base r (fst v), snd v) with
-         | (BBranch b, []) =>                         (* dirty branch: `db/branch` is the branch's working set *)
-           match branch_working r b with
-           | Some w => match assoc t (d_schema w) with
-                       | Some cols => ans_eqb a (ARows cols (rows_of t (d_data w)))
-                       | None => is_error a
-                       end
-           | None => is_error a
-           end
-         | _ => match a with ARows _ _ | AHist _ _ => want_commit r v t a | _ => true end   (* refusing is fine; rows must be the right ones *)
-         end
-o    if revdb_denotes r v then want_commit r v t a
-    else match (norm_base r (fst v), snd v) with
-         | (BBranch b, []) =>                         (* dirty branch: `db/branch` is the branch's working set *)
-           match branch_working r b with
-           | Some w => match assoc t (d_schema w) with
-                       | Some cols => ans_eqb a (ARows cols (rows_of t (d_data w)))
-                       | None => is_error a
-                       end
-           | None => is_error a
-           end
-         | _ => match a with ARows _ _ | AHist _ _ => want_commit r v t a | _ => true end   (* refusing is fine; rows must be the right ones *)
-         end
-r    if revdb_denotes r v then want_commit r v t a
-    else match (norm_base r (fst v), snd v) with
-         | (BBranch b, []) =>                         (* dirty branch: `db/branch` is the branch's working set *)
-           match branch_working r b with
-           | Some w => match assoc t (d_schema w) with
-                       | Some cols => ans_eqb a (ARows cols (rows_of t (d_data w)))
-                       | None => is_error a
-                       end
-           | None => is_error a
-           end
-         | _ => match a with ARows _ _ | AHist _ _ => want_commit r v t a | _ => true end   (* refusing is fine; rows must be the right ones *)
-         end
-d    if revdb_denotes r v then want_commit r v t a
-    else match (norm_base r (fst v), snd v) with
-         | (BBranch b, []) =>                         (* dirty branch: `db/branch` is the branch's working set *)
-           match branch_working r b with
-           | Some w => match assoc t (d_schema w) with
-                       | Some cols => ans_eqb a (ARows cols (rows_of t (d_data w)))
-                       | None => is_error a
-                       end
-           | None => is_error a
-           end
-         | _ => match a with ARows _ _ | AHist _ _ => want_commit r v t a | _ => true end   (* refusing is fine; rows must be the right ones *)
-         end
-e    if revdb_denotes r v then want_commit r v t a
-    else match (norm_base r (fst v), snd v) with
-         | (BBranch b, []) =>                         (* dirty branch: `db/branch` is the branch's working set *)
-           match branch_working r b with
-           | Some w => match assoc t (d_schema w) with
-                       | Some cols => ans_eqb a (ARows cols (rows_of t (d_data w)))
-                       | None => is_error a
-                       end
-           | None => is_error a
-           end
-         | _ => match a with ARows _ _ | AHist _ _ => want_commit r v t a | _ => true end   (* refusing is fine; rows must be the right ones *)
-         end
-d    if revdb_denotes r v then want_commit r v t a
-    else match (norm_base r (fst v), snd v) with
-         | (BBranch b, []) =>                         (* dirty branch: `db/branch` is the branch's working set *)
-           match branch_working r b with
-           | Some w => match assoc t (d_schema w) with
-                       | Some cols => ans_eqb a (ARows cols (rows_of t (d_data w)))
-                       | None => is_error a
-                       end
-           | None => is_error a
-           end
-         | _ => match a with ARows _ _ | AHist _ _ => want_commit r v t a | _ => true end   (* refusing is fine; rows must be the right ones *)
-         end
-     if revdb_denotes r v then want_commit r v t a
-    else match (norm_base r (fst v), snd v) with
-         | (BBranch b, []) =>                         (* dirty branch: `db/branch` is the branch's working set *)
-           match branch_working r b with
-           | Some w => match assoc t (d_schema w) with
-                       | Some cols => ans_eqb a (ARows cols (rows_of t (d_data w)))
-                       | None => is_error a
-                       end
-           | None => is_error a
-           end
-         | _ => match a with ARows _ _ | AHist _ _ => want_commit r v t a | _ => true end   (* refusing is fine; rows must be the right ones *)
-         end
-h    if revdb_denotes r v then want_commit r v t a
-    else match (norm_base r (fst v), snd v) with
-         | (BBranch b, []) =>                         (* dirty branch: `db/branch` is the branch's working set *)
-           match branch_working r b with
-           | Some w => match assoc t (d_schema w) with
-                       | Some cols => ans_eqb a (ARows cols (rows_of t (d_data w)))
-                       | None => is_error a
-                       end
-           | None => is_error a
-           end
-         | _ => match a with ARows _ _ | AHist _ _ => want_commit r v t a | _ => true end   (* refusing is fine; rows must be the right ones *)
-         end
-i    if revdb_denotes r v then want_commit r v t a
-    else match (norm_base r (fst v), snd v) with
-         | (BBranch b, []) =>                         (* dirty branch: `db/branch` is the branch's working set *)
-           match branch_working r b with
-           | Some w => match assoc t (d_schema w) with
-                       | Some cols => ans_eqb a (ARows cols (rows_of t (d_data w)))
-                       | None => is_error a
-                       end
-           | None => is_error a
-           end
-         | _ => match a with ARows _ _ | AHist _ _ => want_commit r v t a | _ => true end   (* refusing is fine; rows must be the right ones *)
-         end
-s    if revdb_denotes r v then want_commit r v t a
-    else match (norm_base r (fst v), snd v) with
-         | (BBranch b, []) =>                         (* dirty branch: `db/branch` is the branch's working set *)
-           match branch_working r b with
-           | Some w => match assoc t (d_schema w) with
-                       | Some cols => ans_eqb a (ARows cols (rows_of t (d_data w)))
-                       | None => is_error a
-                       end
-           | None => is_error a
-           end
-         | _ => match a with ARows _ _ | AHist _ _ => want_commit r v t a | _ => true end   (* refusing is fine; rows must be the right ones *)
-         end
-t    if revdb_denotes r v then want_commit r v t a
-    else match (norm_base r (fst v), snd v) with
-         | (BBranch b, []) =>                         (* dirty branch: `db/branch` is the branch's working set *)
-           match branch_working r b with
-           | Some w => match assoc t (d_schema w) with
-                       | Some cols => ans_eqb a (ARows cols (rows_of t (d_data w)))
-                       | None => is_error a
-                       end
-           | None => is_error a
-           end
-         | _ => match a with ARows _ _ | AHist _ _ => want_commit r v t a | _ => true end   (* refusing is fine; rows must be the right ones *)
-         end
-o    if revdb_denotes r v then want_commit r v t a
-    else match (norm_base r (fst v), snd v) with
-         | (BBranch b, []) =>                         (* dirty branch: `db/branch` is the branch's working set *)
-           match branch_working r b with
-           | Some w => match assoc t (d_schema w) with
-                       | Some cols => ans_eqb a (ARows cols (rows_of t (d_data w)))
-                       | None => is_error a
-                       end
-           | None => is_error a
-           end
-         | _ => match a with ARows _ _ | AHist _ _ => want_commit r v t a | _ => true end   (* refusing is fine; rows must be the right ones *)
-         end
-r    if revdb_denotes r v then want_commit r v t a
-    else match (norm_base r (fst v), snd v) with
-         | (BBranch b, []) =>                         (* dirty branch: `db/branch` is the branch's working set *)
-           match branch_working r b with
-           | Some w => match assoc t (d_schema w) with
-                       | Some cols => ans_eqb a (ARows cols (rows_of t (d_data w)))
-                       | None => is_error a
-                       end
-           | None => is_error a
-           end
-         | _ => match a with ARows _ _ | AHist _ _ => want_commit r v t a | _ => true end   (* refusing is fine; rows must be the right ones *)
-         end
-y    if revdb_denotes r v then want_commit r v t a
-    else match (norm_base r (fst v), snd v) with
-         | (BBranch b, []) =>                         (* dirty branch: `db/branch` is the branch's working set *)
-           match branch_working r b with
-           | Some w => match assoc t (d_schema w) with
-                       | Some cols => ans_eqb a (ARows cols (rows_of t (d_data w)))
-                       | None => is_error a
-                       end
-           | None => is_error a
-           end
-         | _ => match a with ARows _ _ | AHist _ _ => want_commit r v t a | _ => true end   (* refusing is fine; rows must be the right ones *)
-         end
-;    if revdb_denotes r v then want_commit r v t a
-    else match (norm_base r (fst v), snd v) with
-         | (BBranch b, []) =>                         (* dirty branch: `db/branch` is the branch's working set *)
-           match branch_working r b with
-           | Some w => match assoc t (d_schema w) with
-                       | Some cols => ans_eqb a (ARows cols (rows_of t (d_data w)))
-                       | None => is_error a
-                       end
-           | None => is_error a
-           end
-         | _ => match a with ARows _ _ | AHist _ _ => want_commit r v t a | _ => true end   (* refusing is fine; rows must be the right ones *)
-         end
-     if revdb_denotes r v then want_commit r v t a
-    else match (norm_base r (fst v), snd v) with
-         | (BBranch b, []) =>                         (* dirty branch: `db/branch` is the branch's working set *)
-           match branch_working r b with
-           | Some w => match assoc t (d_schema w) with
-                       | Some cols => ans_eqb a (ARows cols (rows_of t (d_data w)))
-                       | None => is_error a
-                       end
-           | None => is_error a
-           end
-         | _ => match a with ARows _ _ | AHist _ _ => want_commit r v t a | _ => true end   (* refusing is fine; rows must be the right ones *)
-         end
-t    if revdb_denotes r v then want_commit r v t a
-    else match (norm_base r (fst v), snd v) with
-         | (BBranch b, []) =>                         (* dirty branch: `db/branch` is the branch's working set *)
-           match branch_working r b with
-           | Some w => match assoc t (d_schema w) with
-                       | Some cols => ans_eqb a (ARows cols (rows_of t (d_data w)))
-                       | None => is_error a
-                       end
-           | None => is_error a
-           end
-         | _ => match a with ARows _ _ | AHist _ _ => want_commit r v t a | _ => true end   (* refusing is fine; rows must be the right ones *)
-         end
-h    if revdb_denotes r v then want_commit r v t a
-    else match (norm_base r (fst v), snd v) with
-         | (BBranch b, []) =>                         (* dirty branch: `db/branch` is the branch's working set *)
-           match branch_working r b with
-           | Some w => match assoc t (d_schema w) with
-                       | Some cols => ans_eqb a (ARows cols (rows_of t (d_data w)))
-                       | None => is_error a
-                       end
-           | None => is_error a
-           end
-         | _ => match a with ARows _ _ | AHist _ _ => want_commit r v t a | _ => true end   (* refusing is fine; rows must be the right ones *)
-         end
-e    if revdb_denotes r v then want_commit r v t a
-    else match (norm_base r (fst v), snd v) with
-         | (BBranch b, []) =>                         (* dirty branch: `db/branch` is the branch's working set *)
-           match branch_working r b with
-           | Some w => match assoc t (d_schema w) with
-                       | Some cols => ans_eqb a (ARows cols (rows_of t (d_data w)))
-                       | None => is_error a
-                       end
-           | None => is_error a
-           end
-         | _ => match a with ARows _ _ | AHist _ _ => want_commit r v t a | _ => true end   (* refusing is fine; rows must be the right ones *)
-         end
-     if revdb_denotes r v then want_commit r v t a
-    else match (norm_base r (fst v), snd v) with
-         | (BBranch b, []) =>                         (* dirty branch: `db/branch` is the branch's working set *)
-           match branch_working r b with
-           | Some w => match assoc t (d_schema w) with
-                       | Some cols => ans_eqb a (ARows cols (rows_of t (d_data w)))
-                       | None => is_error a
-                       end
-           | None => is_error a
-           end
-         | _ => match a with ARows _ _ | AHist _ _ => want_commit r v t a | _ => true end   (* refusing is fine; rows must be the right ones *)
-         end
-o    if revdb_denotes r v then want_commit r v t a
-    else match (norm_base r (fst v), snd v) with
-         | (BBranch b, []) =>                         (* dirty branch: `db/branch` is the branch's working set *)
-           match branch_working r b with
-           | Some w => match assoc t (d_schema w) with
-                       | Some cols => ans_eqb a (ARows cols (rows_of t (d_data w)))
-                       | None => is_error a
-                       end
-           | None => is_error a
-           end
-         | _ => match a with ARows _ _ | AHist _ _ => want_commit r v t a | _ => true end   (* refusing is fine; rows must be the right ones *)
-         end
-r    if revdb_denotes r v then want_commit r v t a
-    else match (norm_base r (fst v), snd v) with
-         | (BBranch b, []) =>                         (* dirty branch: `db/branch` is the branch's working set *)
-           match branch_working r b with
-           | Some w => match assoc t (d_schema w) with
-                       | Some cols => ans_eqb a (ARows cols (rows_of t (d_data w)))
-                       | None => is_error a
-                       end
-           | None => is_error a
-           end
-         | _ => match a with ARows _ _ | AHist _ _ => want_commit r v t a | _ => true end   (* refusing is fine; rows must be the right ones *)
-         end
-a    if revdb_denotes r v then want_commit r v t a
-    else match (norm_base r (fst v), snd v) with
-         | (BBranch b, []) =>                         (* dirty branch: `db/branch` is the branch's working set *)
-           match branch_working r b with
-           | Some w => match assoc t (d_schema w) with
-                       | Some cols => ans_eqb a (ARows cols (rows_of t (d_data w)))
-                       | None => is_error a
-                       end
-           | None => is_error a
-           end
-         | _ => match a with ARows _ _ | AHist _ _ => want_commit r v t a | _ => true end   (* refusing is fine; rows must be the right ones *)
-         end
-c    if revdb_denotes r v then want_commit r v t a
-    else match (norm_base r (fst v), snd v) with
-         | (BBranch b, []) =>                         (* dirty branch: `db/branch` is the branch's working set *)
-           match branch_working r b with
-           | Some w => match assoc t (d_schema w) with
-                       | Some cols => ans_eqb a (ARows cols (rows_of t (d_data w)))
-                       | None => is_error a
-                       end
-           | None => is_error a
-           end
-         | _ => match a with ARows _ _ | AHist _ _ => want_commit r v t a | _ => true end   (* refusing is fine; rows must be the right ones *)
-         end
-l    if revdb_denotes r v then want_commit r v t a
-    else match (norm_base r (fst v), snd v) with
-         | (BBranch b, []) =>                         (* dirty branch: `db/branch` is the branch's working set *)
-           match branch_working r b with
-           | Some w => match assoc t (d_schema w) with
-                       | Some cols => ans_eqb a (ARows cols (rows_of t (d_data w)))
-                       | None => is_error a
-                       end
-           | None => is_error a
-           end
-         | _ => match a with ARows _ _ | AHist _ _ => want_commit r v t a | _ => true end   (* refusing is fine; rows must be the right ones *)
-         end
-e    if revdb_denotes r v then want_commit r v t a
-    else match (norm_base r (fst v), snd v) with
-         | (BBranch b, []) =>                         (* dirty branch: `db/branch` is the branch's working set *)
-           match branch_working r b with
-           | Some w => match assoc t (d_schema w) with
-                       | Some cols => ans_eqb a (ARows cols (rows_of t (d_data w)))
-                       | None => is_error a
-                       end
-           | None => is_error a
-           end
-         | _ => match a with ARows _ _ | AHist _ _ => want_commit r v t a | _ => true end   (* refusing is fine; rows must be the right ones *)
-         end
-     if revdb_denotes r v then want_commit r v t a
-    else match (norm_base r (fst v), snd v) with
-         | (BBranch b, []) =>                         (* dirty branch: `db/branch` is the branch's working set *)
-           match branch_working r b with
-           | Some w => match assoc t (d_schema w) with
-                       | Some cols => ans_eqb a (ARows cols (rows_of t (d_data w)))
-                       | None => is_error a
-                       end
-           | None => is_error a
-           end
-         | _ => match a with ARows _ _ | AHist _ _ => want_commit r v t a | _ => true end   (* refusing is fine; rows must be the right ones *)
-         end
-s    if revdb_denotes r v then want_commit r v t a
-    else match (norm_base r (fst v), snd v) with
-         | (BBranch b, []) =>                         (* dirty branch: `db/branch` is the branch's working set *)
-           match branch_working r b with
-           | Some w => match assoc t (d_schema w) with
-                       | Some cols => ans_eqb a (ARows cols (rows_of t (d_data w)))
-                       | None => is_error a
-                       end
-           | None => is_error a
-           end
-         | _ => match a with ARows _ _ | AHist _ _ => want_commit r v t a | _ => true end   (* refusing is fine; rows must be the right ones *)
-         end
-t    if revdb_denotes r v then want_commit r v t a
-    else match (norm_base r (fst v), snd v) with
-         | (BBranch b, []) =>                         (* dirty branch: `db/branch` is the branch's working set *)
-           match branch_working r b with
-           | Some w => match assoc t (d_schema w) with
-                       | Some cols => ans_eqb a (ARows cols (rows_of t (d_data w)))
-                       | None => is_error a
-                       end
-           | None => is_error a
-           end
-         | _ => match a with ARows _ _ | AHist _ _ => want_commit r v t a | _ => true end   (* refusing is fine; rows must be the right ones *)
-         end
-a    if revdb_denotes r v then want_commit r v t a
-    else match (norm_base r (fst v), snd v) with
-         | (BBranch b, []) =>                         (* dirty branch: `db/branch` is the branch's working set *)
-           match branch_working r b with
-           | Some w => match assoc t (d_schema w) with
-                       | Some cols => ans_eqb a (ARows cols (rows_of t (d_data w)))
-                       | None => is_error a
-                       end
-           | None => is_error a
-           end
-         | _ => match a with ARows _ _ | AHist _ _ => want_commit r v t a | _ => true end   (* refusing is fine; rows must be the right ones *)
-         end
-t    if revdb_denotes r v then want_commit r v t a
-    else match (norm_base r (fst v), snd v) with
-         | (BBranch b, []) =>                         (* dirty branch: `db/branch` is the branch's working set *)
-           match branch_working r b with
-           | Some w => match assoc t (d_schema w) with
-                       | Some cols => ans_eqb a (ARows cols (rows_of t (d_data w)))
-                       | None => is_error a
-                       end
-           | None => is_error a
-           end
-         | _ => match a with ARows _ _ | AHist _ _ => want_commit r v t a | _ => true end   (* refusing is fine; rows must be the right ones *)
-         end
-e    if revdb_denotes r v then want_commit r v t a
-    else match (norm_base r (fst v), snd v) with
-         | (BBranch b, []) =>                         (* dirty branch: `db/branch` is the branch's working set *)
-           match branch_working r b with
-           | Some w => match assoc t (d_schema w) with
-                       | Some cols => ans_eqb a (ARows cols (rows_of t (d_data w)))
-                       | None => is_error a
-                       end
-           | None => is_error a
-           end
-         | _ => match a with ARows _ _ | AHist _ _ => want_commit r v t a | _ => true end   (* refusing is fine; rows must be the right ones *)
-         end
-s    if revdb_denotes r v then want_commit r v t a
-    else match (norm_base r (fst v), snd v) with
-         | (BBranch b, []) =>                         (* dirty branch: `db/branch` is the branch's working set *)
-           match branch_working r b with
-           | Some w => match assoc t (d_schema w) with
-                       | Some cols => ans_eqb a (ARows cols (rows_of t (d_data w)))
-                       | None => is_error a
-                       end
-           | None => is_error a
-           end
-         | _ => match a with ARows _ _ | AHist _ _ => want_commit r v t a | _ => true end   (* refusing is fine; rows must be the right ones *)
-         end
-     if revdb_denotes r v then want_commit r v t a
-    else match (norm_base r (fst v), snd v) with
-         | (BBranch b, []) =>                         (* dirty branch: `db/branch` is the branch's working set *)
-           match branch_working r b with
-           | Some w => match assoc t (d_schema w) with
-                       | Some cols => ans_eqb a (ARows cols (rows_of t (d_data w)))
-                       | None => is_error a
-                       end
-           | None => is_error a
-           end
-         | _ => match a with ARows _ _ | AHist _ _ => want_commit r v t a | _ => true end   (* refusing is fine; rows must be the right ones *)
-         end
-w    if revdb_denotes r v then want_commit r v t a
-    else match (norm_base r (fst v), snd v) with
-         | (BBranch b, []) =>                         (* dirty branch: `db/branch` is the branch's working set *)
-           match branch_working r b with
-           | Some w => match assoc t (d_schema w) with
-                       | Some cols => ans_eqb a (ARows cols (rows_of t (d_data w)))
-                       | None => is_error a
-                       end
-           | None => is_error a
-           end
-         | _ => match a with ARows _ _ | AHist _ _ => want_commit r v t a | _ => true end   (* refusing is fine; rows must be the right ones *)
-         end
-h    if revdb_denotes r v then want_commit r v t a
-    else match (norm_base r (fst v), snd v) with
-         | (BBranch b, []) =>                         (* dirty branch: `db/branch` is the branch's working set *)
-           match branch_working r b with
-           | Some w => match assoc t (d_schema w) with
-                       | Some cols => ans_eqb a (ARows cols (rows_of t (d_data w)))
-                       | None => is_error a
-                       end
-           | None => is_error a
-           end
-         | _ => match a with ARows _ _ | AHist _ _ => want_commit r v t a | _ => true end   (* refusing is fine; rows must be the right ones *)
-         end
-a    if revdb_denotes r v then want_commit r v t a
-    else match (norm_base r (fst v), snd v) with
-         | (BBranch b, []) =>                         (* dirty branch: `db/branch` is the branch's working set *)
-           match branch_working r b with
-           | Some w => match assoc t (d_schema w) with
-                       | Some cols => ans_eqb a (ARows cols (rows_of t (d_data w)))
-                       | None => is_error a
-                       end
-           | None => is_error a
-           end
-         | _ => match a with ARows _ _ | AHist _ _ => want_commit r v t a | _ => true end   (* refusing is fine; rows must be the right ones *)
-         end
-t    if revdb_denotes r v then want_commit r v t a
-    else match (norm_base r (fst v), snd v) with
-         | (BBranch b, []) =>                         (* dirty branch: `db/branch` is the branch's working set *)
-           match branch_working r b with
-           | Some w => match assoc t (d_schema w) with
-                       | Some cols => ans_eqb a (ARows cols (rows_of t (d_data w)))
-                       | None => is_error a
-                       end
-           | None => is_error a
-           end
-         | _ => match a with ARows _ _ | AHist _ _ => want_commit r v t a | _ => true end   (* refusing is fine; rows must be the right ones *)
-         end
-     if revdb_denotes r v then want_commit r v t a
-    else match (norm_base r (fst v), snd v) with
-         | (BBranch b, []) =>                         (* dirty branch: `db/branch` is the branch's working set *)
-           match branch_working r b with
-           | Some w => match assoc t (d_schema w) with
-                       | Some cols => ans_eqb a (ARows cols (rows_of t (d_data w)))
-                       | None => is_error a
-                       end
-           | None => is_error a
-           end
-         | _ => match a with ARows _ _ | AHist _ _ => want_commit r v t a | _ => true end   (* refusing is fine; rows must be the right ones *)
-         end
-t    if revdb_denotes r v then want_commit r v t a
-    else match (norm_base r (fst v), snd v) with
-         | (BBranch b, []) =>                         (* dirty branch: `db/branch` is the branch's working set *)
-           match branch_working r b with
-           | Some w => match assoc t (d_schema w) with
-                       | Some cols => ans_eqb a (ARows cols (rows_of t (d_data w)))
-                       | None => is_error a
-                       end
-           | None => is_error a
-           end
-         | _ => match a with ARows _ _ | AHist _ _ => want_commit r v t a | _ => true end   (* refusing is fine; rows must be the right ones *)
-         end
-h    if revdb_denotes r v then want_commit r v t a
-    else match (norm_base r (fst v), snd v) with
-         | (BBranch b, []) =>                         (* dirty branch: `db/branch` is the branch's working set *)
-           match branch_working r b with
-           | Some w => match assoc t (d_schema w) with
-                       | Some cols => ans_eqb a (ARows cols (rows_of t (d_data w)))
-                       | None => is_error a
-                       end
-           | None => is_error a
-           end
-         | _ => match a with ARows _ _ | AHist _ _ => want_commit r v t a | _ => true end   (* refusing is fine; rows must be the right ones *)
-         end
-e    if revdb_denotes r v then want_commit r v t a
-    else match (norm_base r (fst v), snd v) with
-         | (BBranch b, []) =>                         (* dirty branch: `db/branch` is the branch's working set *)
-           match branch_working r b with
-           | Some w => match assoc t (d_schema w) with
-                       | Some cols => ans_eqb a (ARows cols (rows_of t (d_data w)))
-                       | None => is_error a
-                       end
-           | None => is_error a
-           end
-         | _ => match a with ARows _ _ | AHist _ _ => want_commit r v t a | _ => true end   (* refusing is fine; rows must be the right ones *)
-         end
-
-    if revdb_denotes r v then want_commit r v t a
-    else match (norm_base r (fst v), snd v) with
-         | (BBranch b, []) =>                         (* dirty branch: `db/branch` is the branch's working set *)
-           match branch_working r b with
-           | Some w => match assoc t (d_schema w) with
-                       | Some cols => ans_eqb a (ARows cols (rows_of t (d_data w)))
-                       | None => is_error a
-                       end
-           | None => is_error a
-           end
-         | _ => match a with ARows _ _ | AHist _ _ => want_commit r v t a | _ => true end   (* refusing is fine; rows must be the right ones *)
-         end
-     if revdb_denotes r v then want_commit r v t a
-    else match (norm_base r (fst v), snd v) with
-         | (BBranch b, []) =>                         (* dirty branch: `db/branch` is the branch's working set *)
-           match branch_working r b with
-           | Some w => match assoc t (d_schema w) with
-                       | Some cols => ans_eqb a (ARows cols (rows_of t (d_data w)))
-                       | None => is_error a
-                       end
-           | None => is_error a
-           end
-         | _ => match a with ARows _ _ | AHist _ _ => want_commit r v t a | _ => true end   (* refusing is fine; rows must be the right ones *)
-         end
-     if revdb_denotes r v then want_commit r v t a
-    else match (norm_base r (fst v), snd v) with
-         | (BBranch b, []) =>                         (* dirty branch: `db/branch` is the branch's working set *)
-           match branch_working r b with
-           | Some w => match assoc t (d_schema w) with
-                       | Some cols => ans_eqb a (ARows cols (rows_of t (d_data w)))
-                       | None => is_error a
-                       end
-           | None => is_error a
-           end
-         | _ => match a with ARows _ _ | AHist _ _ => want_commit r v t a | _ => true end   (* refusing is fine; rows must be the right ones *)
-         end
-     if revdb_denotes r v then want_commit r v t a
-    else match (norm_base r (fst v), snd v) with
-         | (BBranch b, []) =>                         (* dirty branch: `db/branch` is the branch's working set *)
-           match branch_working r b with
-           | Some w => match assoc t (d_schema w) with
-                       | Some cols => ans_eqb a (ARows cols (rows_of t (d_data w)))
-                       | None => is_error a
-                       end
-           | None => is_error a
-           end
-         | _ => match a with ARows _ _ | AHist _ _ => want_commit r v t a | _ => true end   (* refusing is fine; rows must be the right ones *)
-         end
-p    if revdb_denotes r v then want_commit r v t a
-    else match (norm_base r (fst v), snd v) with
-         | (BBranch b, []) =>                         (* dirty branch: `db/branch` is the branch's working set *)
-           match branch_working r b with
-           | Some w => match assoc t (d_schema w) with
-                       | Some cols => ans_eqb a (ARows cols (rows_of t (d_data w)))
-                       | None => is_error a
-                       end
-           | None => is_error a
-           end
-         | _ => match a with ARows _ _ | AHist _ _ => want_commit r v t a | _ => true end   (* refusing is fine; rows must be the right ones *)
-         end
-r    if revdb_denotes r v then want_commit r v t a
-    else match (norm_base r (fst v), snd v) with
-         | (BBranch b, []) =>                         (* dirty branch: `db/branch` is the branch's working set *)
-           match branch_working r b with
-           | Some w => match assoc t (d_schema w) with
-                       | Some cols => ans_eqb a (ARows cols (rows_of t (d_data w)))
-                       | None => is_error a
-                       end
-           | None => is_error a
-           end
-         | _ => match a with ARows _ _ | AHist _ _ => want_commit r v t a | _ => true end   (* refusing is fine; rows must be the right ones *)
-         end
-o    if revdb_denotes r v then want_commit r v t a
-    else match (norm_base r (fst v), snd v) with
-         | (BBranch b, []) =>                         (* dirty branch: `db/branch` is the branch's working set *)
-           match branch_working r b with
-           | Some w => match assoc t (d_schema w) with
-                       | Some cols => ans_eqb a (ARows cols (rows_of t (d_data w)))
-                       | None => is_error a
-                       end
-           | None => is_error a
-           end
-         | _ => match a with ARows _ _ | AHist _ _ => want_commit r v t a | _ => true end   (* refusing is fine; rows must be the right ones *)
-         end
-p    if revdb_denotes r v then want_commit r v t a
-    else match (norm_base r (fst v), snd v) with
-         | (BBranch b, []) =>                         (* dirty branch: `db/branch` is the branch's working set *)
-           match branch_working r b with
-           | Some w => match assoc t (d_schema w) with
-                       | Some cols => ans_eqb a (ARows cols (rows_of t (d_data w)))
-                       | None => is_error a
-                       end
-           | None => is_error a
-           end
-         | _ => match a with ARows _ _ | AHist _ _ => want_commit r v t a | _ => true end   (* refusing is fine; rows must be the right ones *)
-         end
-e    if revdb_denotes r v then want_commit r v t a
-    else match (norm_base r (fst v), snd v) with
-         | (BBranch b, []) =>                         (* dirty branch: `db/branch` is the branch's working set *)
-           match branch_working r b with
-           | Some w => match assoc t (d_schema w) with
-                       | Some cols => ans_eqb a (ARows cols (rows_of t (d_data w)))
-                       | None => is_error a
-                       end
-           | None => is_error a
-           end
-         | _ => match a with ARows _ _ | AHist _ _ => want_commit r v t a | _ => true end   (* refusing is fine; rows must be the right ones *)
-         end
-r    if revdb_denotes r v then want_commit r v t a
-    else match (norm_base r (fst v), snd v) with
-         | (BBranch b, []) =>                         (* dirty branch: `db/branch` is the branch's working set *)
-           match branch_working r b with
-           | Some w => match assoc t (d_schema w) with
-                       | Some cols => ans_eqb a (ARows cols (rows_of t (d_data w)))
-                       | None => is_error a
-                       end
-           | None => is_error a
-           end
-         | _ => match a with ARows _ _ | AHist _ _ => want_commit r v t a | _ => true end   (* refusing is fine; rows must be the right ones *)
-         end
-t    if revdb_denotes r v then want_commit r v t a
-    else match (norm_base r (fst v), snd v) with
-         | (BBranch b, []) =>                         (* dirty branch: `db/branch` is the branch's working set *)
-           match branch_working r b with
-           | Some w => match assoc t (d_schema w) with
-                       | Some cols => ans_eqb a (ARows cols (rows_of t (d_data w)))
-                       | None => is_error a
-                       end
-           | None => is_error a
-           end
-         | _ => match a with ARows _ _ | AHist _ _ => want_commit r v t a | _ => true end   (* refusing is fine; rows must be the right ones *)
-         end
-y    if revdb_denotes r v then want_commit r v t a
-    else match (norm_base r (fst v), snd v) with
-         | (BBranch b, []) =>                         (* dirty branch: `db/branch` is the branch's working set *)
-           match branch_working r b with
-           | Some w => match assoc t (d_schema w) with
-                       | Some cols => ans_eqb a (ARows cols (rows_of t (d_data w)))
-                       | None => is_error a
-                       end
-           | None => is_error a
-           end
-         | _ => match a with ARows _ _ | AHist _ _ => want_commit r v t a | _ => true end   (* refusing is fine; rows must be the right ones *)
-         end
-     if revdb_denotes r v then want_commit r v t a
-    else match (norm_base r (fst v), snd v) with
-         | (BBranch b, []) =>                         (* dirty branch: `db/branch` is the branch's working set *)
-           match branch_working r b with
-           | Some w => match assoc t (d_schema w) with
-                       | Some cols => ans_eqb a (ARows cols (rows_of t (d_data w)))
-                       | None => is_error a
-                       end
-           | None => is_error a
-           end
-         | _ => match a with ARows _ _ | AHist _ _ => want_commit r v t a | _ => true end   (* refusing is fine; rows must be the right ones *)
-         end
-d    if revdb_denotes r v then want_commit r v t a
-    else match (norm_base r (fst v), snd v) with
-         | (BBranch b, []) =>                         (* dirty branch: `db/branch` is the branch's working set *)
-           match branch_working r b with
-           | Some w => match assoc t (d_schema w) with
-                       | Some cols => ans_eqb a (ARows cols (rows_of t (d_data w)))
-                       | None => is_error a
-                       end
-           | None => is_error a
-           end
-         | _ => match a with ARows _ _ | AHist _ _ => want_commit r v t a | _ => true end   (* refusing is fine; rows must be the right ones *)
-         end
-e    if revdb_denotes r v then want_commit r v t a
-    else match (norm_base r (fst v), snd v) with
-         | (BBranch b, []) =>                         (* dirty branch: `db/branch` is the branch's working set *)
-           match branch_working r b with
-           | Some w => match assoc t (d_schema w) with
-                       | Some cols => ans_eqb a (ARows cols (rows_of t (d_data w)))
-                       | None => is_error a
-                       end
-           | None => is_error a
-           end
-         | _ => match a with ARows _ _ | AHist _ _ => want_commit r v t a | _ => true end   (* refusing is fine; rows must be the right ones *)
-         end
-m    if revdb_denotes r v then want_commit r v t a
-    else match (norm_base r (fst v), snd v) with
-         | (BBranch b, []) =>                         (* dirty branch: `db/branch` is the branch's working set *)
-           match branch_working r b with
-           | Some w => match assoc t (d_schema w) with
-                       | Some cols => ans_eqb a (ARows cols (rows_of t (d_data w)))
-                       | None => is_error a
-                       end
-           | None => is_error a
-           end
-         | _ => match a with ARows _ _ | AHist _ _ => want_commit r v t a | _ => true end   (* refusing is fine; rows must be the right ones *)
-         end
-a    if revdb_denotes r v then want_commit r v t a
-    else match (norm_base r (fst v), snd v) with
-         | (BBranch b, []) =>                         (* dirty branch: `db/branch` is the branch's working set *)
-           match branch_working r b with
-           | Some w => match assoc t (d_schema w) with
-                       | Some cols => ans_eqb a (ARows cols (rows_of t (d_data w)))
-                       | None => is_error a
-                       end
-           | None => is_error a
-           end
-         | _ => match a with ARows _ _ | AHist _ _ => want_commit r v t a | _ => true end   (* refusing is fine; rows must be the right ones *)
-         end
-n    if revdb_denotes r v then want_commit r v t a
-    else match (norm_base r (fst v), snd v) with
-         | (BBranch b, []) =>                         (* dirty branch: `db/branch` is the branch's working set *)
-           match branch_working r b with
-           | Some w => match assoc t (d_schema w) with
-                       | Some cols => ans_eqb a (ARows cols (rows_of t (d_data w)))
-                       | None => is_error a
-                       end
-           | None => is_error a
-           end
-         | _ => match a with ARows _ _ | AHist _ _ => want_commit r v t a | _ => true end   (* refusing is fine; rows must be the right ones *)
-         end
-d    if revdb_denotes r v then want_commit r v t a
-    else match (norm_base r (fst v), snd v) with
-         | (BBranch b, []) =>                         (* dirty branch: `db/branch` is the branch's working set *)
-           match branch_working r b with
-           | Some w => match assoc t (d_schema w) with
-                       | Some cols => ans_eqb a (ARows cols (rows_of t (d_data w)))
-                       | None => is_error a
-                       end
-           | None => is_error a
-           end
-         | _ => match a with ARows _ _ | AHist _ _ => want_commit r v t a | _ => true end   (* refusing is fine; rows must be the right ones *)
-         end
-s    if revdb_denotes r v then want_commit r v t a
-    else match (norm_base r (fst v), snd v) with
-         | (BBranch b, []) =>                         (* dirty branch: `db/branch` is the branch's working set *)
-           match branch_working r b with
-           | Some w => match assoc t (d_schema w) with
-                       | Some cols => ans_eqb a (ARows cols (rows_of t (d_data w)))
-                       | None => is_error a
-                       end
-           | None => is_error a
-           end
-         | _ => match a with ARows _ _ | AHist _ _ => want_commit r v t a | _ => true end   (* refusing is fine; rows must be the right ones *)
-         end
-     if revdb_denotes r v then want_commit r v t a
-    else match (norm_base r (fst v), snd v) with
-         | (BBranch b, []) =>                         (* dirty branch: `db/branch` is the branch's working set *)
-           match branch_working r b with
-           | Some w => match assoc t (d_schema w) with
-                       | Some cols => ans_eqb a (ARows cols (rows_of t (d_data w)))
-                       | None => is_error a
-                       end
-           | None => is_error a
-           end
-         | _ => match a with ARows _ _ | AHist _ _ => want_commit r v t a | _ => true end   (* refusing is fine; rows must be the right ones *)
-         end
-o    if revdb_denotes r v then want_commit r v t a
-    else match (norm_base r (fst v), snd v) with
-         | (BBranch b, []) =>                         (* dirty branch: `db/branch` is the branch's working set *)
-           match branch_working r b with
-           | Some w => match assoc t (d_schema w) with
-                       | Some cols => ans_eqb a (ARows cols (rows_of t (d_data w)))
-                       | None => is_error a
-                       end
-           | None => is_error a
-           end
-         | _ => match a with ARows _ _ | AHist _ _ => want_commit r v t a | _ => true end   (* refusing is fine; rows must be the right ones *)
-         end
-f    if revdb_denotes r v then want_commit r v t a
-    else match (norm_base r (fst v), snd v) with
-         | (BBranch b, []) =>                         (* dirty branch: `db/branch` is the branch's working set *)
-           match branch_working r b with
-           | Some w => match assoc t (d_schema w) with
-                       | Some cols => ans_eqb a (ARows cols (rows_of t (d_data w)))
-                       | None => is_error a
-                       end
-           | None => is_error a
-           end
-         | _ => match a with ARows _ _ | AHist _ _ => want_commit r v t a | _ => true end   (* refusing is fine; rows must be the right ones *)
-         end
-     if revdb_denotes r v then want_commit r v t a
-    else match (norm_base r (fst v), snd v) with
-         | (BBranch b, []) =>                         (* dirty branch: `db/branch` is the branch's working set *)
-           match branch_working r b with
-           | Some w => match assoc t (d_schema w) with
-                       | Some cols => ans_eqb a (ARows cols (rows_of t (d_data w)))
-                       | None => is_error a
-                       end
-           | None => is_error a
-           end
-         | _ => match a with ARows _ _ | AHist _ _ => want_commit r v t a | _ => true end   (* refusing is fine; rows must be the right ones *)
-         end
-e    if revdb_denotes r v then want_commit r v t a
-    else match (norm_base r (fst v), snd v) with
-         | (BBranch b, []) =>                         (* dirty branch: `db/branch` is the branch's working set *)
-           match branch_working r b with
-           | Some w => match assoc t (d_schema w) with
-                       | Some cols => ans_eqb a (ARows cols (rows_of t (d_data w)))
-                       | None => is_error a
-                       end
-           | None => is_error a
-           end
-         | _ => match a with ARows _ _ | AHist _ _ => want_commit r v t a | _ => true end   (* refusing is fine; rows must be the right ones *)
-         end
-a    if revdb_denotes r v then want_commit r v t a
-    else match (norm_base r (fst v), snd v) with
-         | (BBranch b, []) =>                         (* dirty branch: `db/branch` is the branch's working set *)
-           match branch_working r b with
-           | Some w => match assoc t (d_schema w) with
-                       | Some cols => ans_eqb a (ARows cols (rows_of t (d_data w)))
-                       | None => is_error a
-                       end
-           | None => is_error a
-           end
-         | _ => match a with ARows _ _ | AHist _ _ => want_commit r v t a | _ => true end   (* refusing is fine; rows must be the right ones *)
-         end
-c    if revdb_denotes r v then want_commit r v t a
-    else match (norm_base r (fst v), snd v) with
-         | (BBranch b, []) =>                         (* dirty branch: `db/branch` is the branch's working set *)
-           match branch_working r b with
-           | Some w => match assoc t (d_schema w) with
-                       | Some cols => ans_eqb a (ARows cols (rows_of t (d_data w)))
-                       | None => is_error a
-                       end
-           | None => is_error a
-           end
-         | _ => match a with ARows _ _ | AHist _ _ => want_commit r v t a | _ => true end   (* refusing is fine; rows must be the right ones *)
-         end
-h    if revdb_denotes r v then want_commit r v t a
-    else match (norm_base r (fst v), snd v) with
-         | (BBranch b, []) =>                         (* dirty branch: `db/branch` is the branch's working set *)
-           match branch_working r b with
-           | Some w => match assoc t (d_schema w) with
-                       | Some cols => ans_eqb a (ARows cols (rows_of t (d_data w)))
-                       | None => is_error a
-                       end
-           | None => is_error a
-           end
-         | _ => match a with ARows _ _ | AHist _ _ => want_commit r v t a | _ => true end   (* refusing is fine; rows must be the right ones *)
-         end
-     if revdb_denotes r v then want_commit r v t a
-    else match (norm_base r (fst v), snd v) with
-         | (BBranch b, []) =>                         (* dirty branch: `db/branch` is the branch's working set *)
-           match branch_working r b with
-           | Some w => match assoc t (d_schema w) with
-                       | Some cols => ans_eqb a (ARows cols (rows_of t (d_data w)))
-                       | None => is_error a
-                       end
-           | None => is_error a
-           end
-         | _ => match a with ARows _ _ | AHist _ _ => want_commit r v t a | _ => true end   (* refusing is fine; rows must be the right ones *)
-         end
-a    if revdb_denotes r v then want_commit r v t a
-    else match (norm_base r (fst v), snd v) with
-         | (BBranch b, []) =>                         (* dirty branch: `db/branch` is the branch's working set *)
-           match branch_working r b with
-           | Some w => match assoc t (d_schema w) with
-                       | Some cols => ans_eqb a (ARows cols (rows_of t (d_data w)))
-                       | None => is_error a
-                       end
-           | None => is_error a
-           end
-         | _ => match a with ARows _ _ | AHist _ _ => want_commit r v t a | _ => true end   (* refusing is fine; rows must be the right ones *)
-         end
-n    if revdb_denotes r v then want_commit r v t a
-    else match (norm_base r (fst v), snd v) with
-         | (BBranch b, []) =>                         (* dirty branch: `db/branch` is the branch's working set *)
-           match branch_working r b with
-           | Some w => match assoc t (d_schema w) with
-                       | Some cols => ans_eqb a (ARows cols (rows_of t (d_data w)))
-                       | None => is_error a
-                       end
-           | None => is_error a
-           end
-         | _ => match a with ARows _ _ | AHist _ _ => want_commit r v t a | _ => true end   (* refusing is fine; rows must be the right ones *)
-         end
-s    if revdb_denotes r v then want_commit r v t a
-    else match (norm_base r (fst v), snd v) with
-         | (BBranch b, []) =>                         (* dirty branch: `db/branch` is the branch's working set *)
-           match branch_working r b with
-           | Some w => match assoc t (d_schema w) with
-                       | Some cols => ans_eqb a (ARows cols (rows_of t (d_data w)))
-                       | None => is_error a
-                       end
-           | None => is_error a
-           end
-         | _ => match a with ARows _ _ | AHist _ _ => want_commit r v t a | _ => true end   (* refusing is fine; rows must be the right ones *)
-         end
-w    if revdb_denotes r v then want_commit r v t a
-    else match (norm_base r (fst v), snd v) with
-         | (BBranch b, []) =>                         (* dirty branch: `db/branch` is the branch's working set *)
-           match branch_working r b with
-           | Some w => match assoc t (d_schema w) with
-                       | Some cols => ans_eqb a (ARows cols (rows_of t (d_data w)))
-                       | None => is_error a
-                       end
-           | None => is_error a
-           end
-         | _ => match a with ARows _ _ | AHist _ _ => want_commit r v t a | _ => true end   (* refusing is fine; rows must be the right ones *)
-         end
-e    if revdb_denotes r v then want_commit r v t a
-    else match (norm_base r (fst v), snd v) with
-         | (BBranch b, []) =>                         (* dirty branch: `db/branch` is the branch's working set *)
-           match branch_working r b with
-           | Some w => match assoc t (d_schema w) with
-                       | Some cols => ans_eqb a (ARows cols (rows_of t (d_data w)))
-                       | None => is_error a
-                       end
-           | None => is_error a
-           end
-         | _ => match a with ARows _ _ | AHist _ _ => want_commit r v t a | _ => true end   (* refusing is fine; rows must be the right ones *)
-         end
-r    if revdb_denotes r v then want_commit r v t a
-    else match (norm_base r (fst v), snd v) with
-         | (BBranch b, []) =>                         (* dirty branch: `db/branch` is the branch's working set *)
-           match branch_working r b with
-           | Some w => match assoc t (d_schema w) with
-                       | Some cols => ans_eqb a (ARows cols (rows_of t (d_data w)))
-                       | None => is_error a
-                       end
-           | None => is_error a
-           end
-         | _ => match a with ARows _ _ | AHist _ _ => want_commit r v t a | _ => true end   (* refusing is fine; rows must be the right ones *)
-         end
-.    if revdb_denotes r v then want_commit r v t a
-    else match (norm_base r (fst v), snd v) with
-         | (BBranch b, []) =>                         (* dirty branch: `db/branch` is the branch's working set *)
-           match branch_working r b with
-           | Some w => match assoc t (d_schema w) with
-                       | Some cols => ans_eqb a (ARows cols (rows_of t (d_data w)))
-                       | None => is_error a
-                       end
-           | None => is_error a
-           end
-         | _ => match a with ARows _ _ | AHist _ _ => want_commit r v t a | _ => true end   (* refusing is fine; rows must be the right ones *)
-         end
-     if revdb_denotes r v then want_commit r v t a
-    else match (norm_base r (fst v), snd v) with
-         | (BBranch b, []) =>                         (* dirty branch: `db/branch` is the branch's working set *)
-           match branch_working r b with
-           | Some w => match assoc t (d_schema w) with
-                       | Some cols => ans_eqb a (ARows cols (rows_of t (d_data w)))
-                       | None => is_error a
-                       end
-           | None => is_error a
-           end
-         | _ => match a with ARows _ _ | AHist _ _ => want_commit r v t a | _ => true end   (* refusing is fine; rows must be the right ones *)
-         end
-*    if revdb_denotes r v then want_commit r v t a
-    else match (norm_base r (fst v), snd v) with
-         | (BBranch b, []) =>                         (* dirty branch: `db/branch` is the branch's working set *)
-           match branch_working r b with
-           | Some w => match assoc t (d_schema w) with
-                       | Some cols => ans_eqb a (ARows cols (rows_of t (d_data w)))
-                       | None => is_error a
-                       end
-           | None => is_error a
-           end
-         | _ => match a with ARows _ _ | AHist _ _ => want_commit r v t a | _ => true end   (* refusing is fine; rows must be the right ones *)
-         end
-)    if revdb_denotes r v then want_commit r v t a
-    else match (norm_base r (fst v), snd v) with
-         | (BBranch b, []) =>                         (* dirty branch: `db/branch` is the branch's working set *)
-           match branch_working r b with
-           | Some w => match assoc t (d_schema w) with
-                       | Some cols => ans_eqb a (ARows cols (rows_of t (d_data w)))
-                       | None => is_error a
-                       end
-           | None => is_error a
-           end
-         | _ => match a with ARows _ _ | AHist _ _ => want_commit r v t a | _ => true end   (* refusing is fine; rows must be the right ones *)
-         end
-
-    if revdb_denotes r v then want_commit r v t a
-    else match (norm_base r (fst v), snd v) with
-         | (BBranch b, []) =>                         (* dirty branch: `db/branch` is the branch's working set *)
-           match branch_working r b with
-           | Some w => match assoc t (d_schema w) with
-                       | Some cols => ans_eqb a (ARows cols (rows_of t (d_data w)))
-                       | None => is_error a
-                       end
-           | None => is_error a
-           end
-         | _ => match a with ARows _ _ | AHist _ _ => want_commit r v t a | _ => true end   (* refusing is fine; rows must be the right ones *)
-         end
-F    if revdb_denotes r v then want_commit r v t a
-    else match (norm_base r (fst v), snd v) with
-         | (BBranch b, []) =>                         (* dirty branch: `db/branch` is the branch's working set *)
-           match branch_working r b with
-           | Some w => match assoc t (d_schema w) with
-                       | Some cols => ans_eqb a (ARows cols (rows_of t (d_data w)))
-                       | None => is_error a
-                       end
-           | None => is_error a
-           end
-         | _ => match a with ARows _ _ | AHist _ _ => want_commit r v t a | _ => true end   (* refusing is fine; rows must be the right ones *)
-         end
-r    if revdb_denotes r v then want_commit r v t a
-    else match (norm_base r (fst v), snd v) with
-         | (BBranch b, []) =>                         (* dirty branch: `db/branch` is the branch's working set *)
-           match branch_working r b with
-           | Some w => match assoc t (d_schema w) with
-                       | Some cols => ans_eqb a (ARows cols (rows_of t (d_data w)))
-                       | None => is_error a
-                       end
-           | None => is_error a
-           end
-         | _ => match a with ARows _ _ | AHist _ _ => want_commit r v t a | _ => true end   (* refusing is fine; rows must be the right ones *)
-         end
-o    if revdb_denotes r v then want_commit r v t a
-    else match (norm_base r (fst v), snd v) with
-         | (BBranch b, []) =>                         (* dirty branch: `db/branch` is the branch's working set *)
-           match branch_working r b with
-           | Some w => match assoc t (d_schema w) with
-                       | Some cols => ans_eqb a (ARows cols (rows_of t (d_data w)))
-                       | None => is_error a
-                       end
-           | None => is_error a
-           end
-         | _ => match a with ARows _ _ | AHist _ _ => want_commit r v t a | _ => true end   (* refusing is fine; rows must be the right ones *)
-         end
-m    if revdb_denotes r v then want_commit r v t a
-    else match (norm_base r (fst v), snd v) with
-         | (BBranch b, []) =>                         (* dirty branch: `db/branch` is the branch's working set *)
-           match branch_working r b with
-           | Some w => match assoc t (d_schema w) with
-                       | Some cols => ans_eqb a (ARows cols (rows_of t (d_data w)))
-                       | None => is_error a
-                       end
-           | None => is_error a
-           end
-         | _ => match a with ARows _ _ | AHist _ _ => want_commit r v t a | _ => true end   (* refusing is fine; rows must be the right ones *)
-         end
-     if revdb_denotes r v then want_commit r v t a
-    else match (norm_base r (fst v), snd v) with
-         | (BBranch b, []) =>                         (* dirty branch: `db/branch` is the branch's working set *)
-           match branch_working r b with
-           | Some w => match assoc t (d_schema w) with
-                       | Some cols => ans_eqb a (ARows cols (rows_of t (d_data w)))
-                       | None => is_error a
-                       end
-           | None => is_error a
-           end
-         | _ => match a with ARows _ _ | AHist _ _ => want_commit r v t a | _ => true end   (* refusing is fine; rows must be the right ones *)
-         end
-C    if revdb_denotes r v then want_commit r v t a
-    else match (norm_base r (fst v), snd v) with
-         | (BBranch b, []) =>                         (* dirty branch: `db/branch` is the branch's working set *)
-           match branch_working r b with
-           | Some w => match assoc t (d_schema w) with
-                       | Some cols => ans_eqb a (ARows cols (rows_of t (d_data w)))
-                       | None => is_error a
-                       end
-           | None => is_error a
-           end
-         | _ => match a with ARows _ _ | AHist _ _ => want_commit r v t a | _ => true end   (* refusing is fine; rows must be the right ones *)
-         end
-o    if revdb_denotes r v then want_commit r v t a
-    else match (norm_base r (fst v), snd v) with
-         | (BBranch b, []) =>                         (* dirty branch: `db/branch` is the branch's working set *)
-           match branch_working r b with
-           | Some w => match assoc t (d_schema w) with
-                       | Some cols => ans_eqb a (ARows cols (rows_of t (d_data w)))
-                       | None => is_error a
-                       end
-           | None => is_error a
-           end
-         | _ => match a with ARows _ _ | AHist _ _ => want_commit r v t a | _ => true end   (* refusing is fine; rows must be the right ones *)
-         end
-q    if revdb_denotes r v then want_commit r v t a
-    else match (norm_base r (fst v), snd v) with
-         | (BBranch b, []) =>                         (* dirty branch: `db/branch` is the branch's working set *)
-           match branch_working r b with
-           | Some w => match assoc t (d_schema w) with
-                       | Some cols => ans_eqb a (ARows cols (rows_of t (d_data w)))
-                       | None => is_error a
-                       end
-           | None => is_error a
-           end
-         | _ => match a with ARows _ _ | AHist _ _ => want_commit r v t a | _ => true end   (* refusing is fine; rows must be the right ones *)
-         end
-     if revdb_denotes r v then want_commit r v t a
-    else match (norm_base r (fst v), snd v) with
-         | (BBranch b, []) =>                         (* dirty branch: `db/branch` is the branch's working set *)
-           match branch_working r b with
-           | Some w => match assoc t (d_schema w) with
-                       | Some cols => ans_eqb a (ARows cols (rows_of t (d_data w)))
-                       | None => is_error a
-                       end
-           | None => is_error a
-           end
-         | _ => match a with ARows _ _ | AHist _ _ => want_commit r v t a | _ => true end   (* refusing is fine; rows must be the right ones *)
-         end
-R    if revdb_denotes r v then want_commit r v t a
-    else match (norm_base r (fst v), snd v) with
-         | (BBranch b, []) =>                         (* dirty branch: `db/branch` is the branch's working set *)
-           match branch_working r b with
-           | Some w => match assoc t (d_schema w) with
-                       | Some cols => ans_eqb a (ARows cols (rows_of t (d_data w)))
-                       | None => is_error a
-                       end
-           | None => is_error a
-           end
-         | _ => match a with ARows _ _ | AHist _ _ => want_commit r v t a | _ => true end   (* refusing is fine; rows must be the right ones *)
-         end
-e    if revdb_denotes r v then want_commit r v t a
-    else match (norm_base r (fst v), snd v) with
-         | (BBranch b, []) =>                         (* dirty branch: `db/branch` is the branch's working set *)
-           match branch_working r b with
-           | Some w => match assoc t (d_schema w) with
-                       | Some cols => ans_eqb a (ARows cols (rows_of t (d_data w)))
-                       | None => is_error a
-                       end
-           | None => is_error a
-           end
-         | _ => match a with ARows _ _ | AHist _ _ => want_commit r v t a | _ => true end   (* refusing is fine; rows must be the right ones *)
-         end
-q    if revdb_denotes r v then want_commit r v t a
-    else match (norm_base r (fst v), snd v) with
-         | (BBranch b, []) =>                         (* dirty branch: `db/branch` is the branch's working set *)
-           match branch_working r b with
-           | Some w => match assoc t (d_schema w) with
-                       | Some cols => ans_eqb a (ARows cols (rows_of t (d_data w)))
-                       | None => is_error a
-                       end
-           | None => is_error a
-           end
-         | _ => match a with ARows _ _ | AHist _ _ => want_commit r v t a | _ => true end   (* refusing is fine; rows must be the right ones *)
-         end
-u    if revdb_denotes r v then want_commit r v t a
-    else match (norm_base r (fst v), snd v) with
-         | (BBranch b, []) =>                         (* dirty branch: `db/branch` is the branch's working set *)
-           match branch_working r b with
-           | Some w => match assoc t (d_schema w) with
-                       | Some cols => ans_eqb a (ARows cols (rows_of t (d_data w)))
-                       | None => is_error a
-                       end
-           | None => is_error a
-           end
-         | _ => match a with ARows _ _ | AHist _ _ => want_commit r v t a | _ => true end   (* refusing is fine; rows must be the right ones *)
-         end
-i    if revdb_denotes r v then want_commit r v t a
-    else match (norm_base r (fst v), snd v) with
-         | (BBranch b, []) =>                         (* dirty branch: `db/branch` is the branch's working set *)
-           match branch_working r b with
-           | Some w => match assoc t (d_schema w) with
-                       | Some cols => ans_eqb a (ARows cols (rows_of t (d_data w)))
-                       | None => is_error a
-                       end
-           | None => is_error a
-           end
-         | _ => match a with ARows _ _ | AHist _ _ => want_commit r v t a | _ => true end   (* refusing is fine; rows must be the right ones *)
-         end
-r    if revdb_denotes r v then want_commit r v t a
-    else match (norm_base r (fst v), snd v) with
-         | (BBranch b, []) =>                         (* dirty branch: `db/branch` is the branch's working set *)
-           match branch_working r b with
-           | Some w => match assoc t (d_schema w) with
-                       | Some cols => ans_eqb a (ARows cols (rows_of t (d_data w)))
-                       | None => is_error a
-                       end
-           | None => is_error a
-           end
-         | _ => match a with ARows _ _ | AHist _ _ => want_commit r v t a | _ => true end   (* refusing is fine; rows must be the right ones *)
-         end
-e    if revdb_denotes r v then want_commit r v t a
-    else match (norm_base r (fst v), snd v) with
-         | (BBranch b, []) =>                         (* dirty branch: `db/branch` is the branch's working set *)
-           match branch_working r b with
-           | Some w => match assoc t (d_schema w) with
-                       | Some cols => ans_eqb a (ARows cols (rows_of t (d_data w)))
-                       | None => is_error a
-                       end
-           | None => is_error a
-           end
-         | _ => match a with ARows _ _ | AHist _ _ => want_commit r v t a | _ => true end   (* refusing is fine; rows must be the right ones *)
-         end
-     if revdb_denotes r v then want_commit r v t a
-    else match (norm_base r (fst v), snd v) with
-         | (BBranch b, []) =>                         (* dirty branch: `db/branch` is the branch's working set *)
-           match branch_working r b with
-           | Some w => match assoc t (d_schema w) with
-                       | Some cols => ans_eqb a (ARows cols (rows_of t (d_data w)))
-                       | None => is_error a
-                       end
-           | None => is_error a
-           end
-         | _ => match a with ARows _ _ | AHist _ _ => want_commit r v t a | _ => true end   (* refusing is fine; rows must be the right ones *)
-         end
-I    if revdb_denotes r v then want_commit r v t a
-    else match (norm_base r (fst v), snd v) with
-         | (BBranch b, []) =>                         (* dirty branch: `db/branch` is the branch's working set *)
-           match branch_working r b with
-           | Some w => match assoc t (d_schema w) with
-                       | Some cols => ans_eqb a (ARows cols (rows_of t (d_data w)))
-                       | None => is_error a
-                       end
-           | None => is_error a
-           end
-         | _ => match a with ARows _ _ | AHist _ _ => want_commit r v t a | _ => true end   (* refusing is fine; rows must be the right ones *)
-         end
-m    if revdb_denotes r v then want_commit r v t a
-    else match (norm_base r (fst v), snd v) with
-         | (BBranch b, []) =>                         (* dirty branch: `db/branch` is the branch's working set *)
-           match branch_working r b with
-           | Some w => match assoc t (d_schema w) with
-                       | Some cols => ans_eqb a (ARows cols (rows_of t (d_data w)))
-                       | None => is_error a
-                       end
-           | None => is_error a
-           end
-         | _ => match a with ARows _ _ | AHist _ _ => want_commit r v t a | _ => true end   (* refusing is fine; rows must be the right ones *)
-         end
-p    if revdb_denotes r v then want_commit r v t a
-    else match (norm_base r (fst v), snd v) with
-         | (BBranch b, []) =>                         (* dirty branch: `db/branch` is the branch's working set *)
-           match branch_working r b with
-           | Some w => match assoc t (d_schema w) with
-                       | Some cols => ans_eqb a (ARows cols (rows_of t (d_data w)))
-                       | None => is_error a
-                       end
-           | None => is_error a
-           end
-         | _ => match a with ARows _ _ | AHist _ _ => want_commit r v t a | _ => true end   (* refusing is fine; rows must be the right ones *)
-         end
-o    if revdb_denotes r v then want_commit r v t a
-    else match (norm_base r (fst v), snd v) with
-         | (BBranch b, []) =>                         (* dirty branch: `db/branch` is the branch's working set *)
-           match branch_working r b with
-           | Some w => match assoc t (d_schema w) with
-                       | Some cols => ans_eqb a (ARows cols (rows_of t (d_data w)))
-                       | None => is_error a
-                       end
-           | None => is_error a
-           end
-         | _ => match a with ARows _ _ | AHist _ _ => want_commit r v t a | _ => true end   (* refusing is fine; rows must be the right ones *)
-         end
-r    if revdb_denotes r v then want_commit r v t a
-    else match (norm_base r (fst v), snd v) with
-         | (BBranch b, []) =>                         (* dirty branch: `db/branch` is the branch's working set *)
-           match branch_working r b with
-           | Some w => match assoc t (d_schema w) with
-                       | Some cols => ans_eqb a (ARows cols (rows_of t (d_data w)))
-                       | None => is_error a
-                       end
-           | None => is_error a
-           end
-         | _ => match a with ARows _ _ | AHist _ _ => want_commit r v t a | _ => true end   (* refusing is fine; rows must be the right ones *)
-         end
-t    if revdb_denotes r v then want_commit r v t a
-    else match (norm_base r (fst v), snd v) with
-         | (BBranch b, []) =>                         (* dirty branch: `db/branch` is the branch's working set *)
-           match branch_working r b with
-           | Some w => match assoc t (d_schema w) with
-                       | Some cols => ans_eqb a (ARows cols (rows_of t (d_data w)))
-                       | None => is_error a
-                       end
-           | None => is_error a
-           end
-         | _ => match a with ARows _ _ | AHist _ _ => want_commit r v t a | _ => true end   (* refusing is fine; rows must be the right ones *)
-         end
-     if revdb_denotes r v then want_commit r v t a
-    else match (norm_base r (fst v), snd v) with
-         | (BBranch b, []) =>                         (* dirty branch: `db/branch` is the branch's working set *)
-           match branch_working r b with
-           | Some w => match assoc t (d_schema w) with
-                       | Some cols => ans_eqb a (ARows cols (rows_of t (d_data w)))
-                       | None => is_error a
-                       end
-           | None => is_error a
-           end
-         | _ => match a with ARows _ _ | AHist _ _ => want_commit r v t a | _ => true end   (* refusing is fine; rows must be the right ones *)
-         end
-N    if revdb_denotes r v then want_commit r v t a
-    else match (norm_base r (fst v), snd v) with
-         | (BBranch b, []) =>                         (* dirty branch: `db/branch` is the branch's working set *)
-           match branch_working r b with
-           | Some w => match assoc t (d_schema w) with
-                       | Some cols => ans_eqb a (ARows cols (rows_of t (d_data w)))
-                       | None => is_error a
-                       end
-           | None => is_error a
-           end
-         | _ => match a with ARows _ _ | AHist _ _ => want_commit r v t a | _ => true end   (* refusing is fine; rows must be the right ones *)
-         end
-A    if revdb_denotes r v then want_commit r v t a
-    else match (norm_base r (fst v), snd v) with
-         | (BBranch b, []) =>                         (* dirty branch: `db/branch` is the branch's working set *)
-           match branch_working r b with
-           | Some w => match assoc t (d_schema w) with
-                       | Some cols => ans_eqb a (ARows cols (rows_of t (d_data w)))
-                       | None => is_error a
-                       end
-           | None => is_error a
-           end
-         | _ => match a with ARows _ _ | AHist _ _ => want_commit r v t a | _ => true end   (* refusing is fine; rows must be the right ones *)
-         end
-r    if revdb_denotes r v then want_commit r v t a
-    else match (norm_base r (fst v), snd v) with
-         | (BBranch b, []) =>                         (* dirty branch: `db/branch` is the branch's working set *)
-           match branch_working r b with
-           | Some w => match assoc t (d_schema w) with
-                       | Some cols => ans_eqb a (ARows cols (rows_of t (d_data w)))
-                       | None => is_error a
-                       end
-           | None => is_error a
-           end
-         | _ => match a with ARows _ _ | AHist _ _ => want_commit r v t a | _ => true end   (* refusing is fine; rows must be the right ones *)
-         end
-i    if revdb_denotes r v then want_commit r v t a
-    else match (norm_base r (fst v), snd v) with
-         | (BBranch b, []) =>                         (* dirty branch: `db/branch` is the branch's working set *)
-           match branch_working r b with
-           | Some w => match assoc t (d_schema w) with
-                       | Some cols => ans_eqb a (ARows cols (rows_of t (d_data w)))
-                       | None => is_error a
-                       end
-           | None => is_error a
-           end
-         | _ => match a with ARows _ _ | AHist _ _ => want_commit r v t a | _ => true end   (* refusing is fine; rows must be the right ones *)
-         end
-t    if revdb_denotes r v then want_commit r v t a
-    else match (norm_base r (fst v), snd v) with
-         | (BBranch b, []) =>                         (* dirty branch: `db/branch` is the branch's working set *)
-           match branch_working r b with
-           | Some w => match assoc t (d_schema w) with
-                       | Some cols => ans_eqb a (ARows cols (rows_of t (d_data w)))
-                       | None => is_error a
-                       end
-           | None => is_error a
-           end
-         | _ => match a with ARows _ _ | AHist _ _ => want_commit r v t a | _ => true end   (* refusing is fine; rows must be the right ones *)
-         end
-h    if revdb_denotes r v then want_commit r v t a
-    else match (norm_base r (fst v), snd v) with
-         | (BBranch b, []) =>                         (* dirty branch: `db/branch` is the branch's working set *)
-           match branch_working r b with
-           | Some w => match assoc t (d_schema w) with
-                       | Some cols => ans_eqb a (ARows cols (rows_of t (d_data w)))
-                       | None => is_error a
-                       end
-           | None => is_error a
-           end
-         | _ => match a with ARows _ _ | AHist _ _ => want_commit r v t a | _ => true end   (* refusing is fine; rows must be the right ones *)
-         end
-     if revdb_denotes r v then want_commit r v t a
-    else match (norm_base r (fst v), snd v) with
-         | (BBranch b, []) =>                         (* dirty branch: `db/branch` is the branch's working set *)
-           match branch_working r b with
-           | Some w => match assoc t (d_schema w) with
-                       | Some cols => ans_eqb a (ARows cols (rows_of t (d_data w)))
-                       | None => is_error a
-                       end
-           | None => is_error a
-           end
-         | _ => match a with ARows _ _ | AHist _ _ => want_commit r v t a | _ => true end   (* refusing is fine; rows must be the right ones *)
-         end
-L    if revdb_denotes r v then want_commit r v t a
-    else match (norm_base r (fst v), snd v) with
-         | (BBranch b, []) =>                         (* dirty branch: `db/branch` is the branch's working set *)
-           match branch_working r b with
-           | Some w => match assoc t (d_schema w) with
-                       | Some cols => ans_eqb a (ARows cols (rows_of t (d_data w)))
-                       | None => is_error a
-                       end
-           | None => is_error a
-           end
-         | _ => match a with ARows _ _ | AHist _ _ => want_commit r v t a | _ => true end   (* refusing is fine; rows must be the right ones *)
-         end
-i    if revdb_denotes r v then want_commit r v t a
-    else match (norm_base r (fst v), snd v) with
-         | (BBranch b, []) =>                         (* dirty branch: `db/branch` is the branch's working set *)
-           match branch_working r b with
-           | Some w => match assoc t (d_schema w) with
-                       | Some cols => ans_eqb a (ARows cols (rows_of t (d_data w)))
-                       | None => is_error a
-                       end
-           | None => is_error a
-           end
-         | _ => match a with ARows _ _ | AHist _ _ => want_commit r v t a | _ => true end   (* refusing is fine; rows must be the right ones *)
-         end
-s    if revdb_denotes r v then want_commit r v t a
-    else match (norm_base r (fst v), snd v) with
-         | (BBranch b, []) =>                         (* dirty branch: `db/branch` is the branch's working set *)
-           match branch_working r b with
-           | Some w => match assoc t (d_schema w) with
-                       | Some cols => ans_eqb a (ARows cols (rows_of t (d_data w)))
-                       | None => is_error a
-                       end
-           | None => is_error a
-           end
-         | _ => match a with ARows _ _ | AHist _ _ => want_commit r v t a | _ => true end   (* refusing is fine; rows must be the right ones *)
-         end
-t    if revdb_denotes r v then want_commit r v t a
-    else match (norm_base r (fst v), snd v) with
-         | (BBranch b, []) =>                         (* dirty branch: `db/branch` is the branch's working set *)
-           match branch_working r b with
-           | Some w => match assoc t (d_schema w) with
-                       | Some cols => ans_eqb a (ARows cols (rows_of t (d_data w)))
-                       | None => is_error a
-                       end
-           | None => is_error a
-           end
-         | _ => match a with ARows _ _ | AHist _ _ => want_commit r v t a | _ => true end   (* refusing is fine; rows must be the right ones *)
-         end
-     if revdb_denotes r v then want_commit r v t a
-    else match (norm_base r (fst v), snd v) with
-         | (BBranch b, []) =>                         (* dirty branch: `db/branch` is the branch's working set *)
-           match branch_working r b with
-           | Some w => match assoc t (d_schema w) with
-                       | Some cols => ans_eqb a (ARows cols (rows_of t (d_data w)))
-                       | None => is_error a
-                       end
-           | None => is_error a
-           end
-         | _ => match a with ARows _ _ | AHist _ _ => want_commit r v t a | _ => true end   (* refusing is fine; rows must be the right ones *)
-         end
-B    if revdb_denotes r v then want_commit r v t a
-    else match (norm_base r (fst v), snd v) with
-         | (BBranch b, []) =>                         (* dirty branch: `db/branch` is the branch's working set *)
-           match branch_working r b with
-           | Some w => match assoc t (d_schema w) with
-                       | Some cols => ans_eqb a (ARows cols (rows_of t (d_data w)))
-                       | None => is_error a
-                       end
-           | None => is_error a
-           end
-         | _ => match a with ARows _ _ | AHist _ _ => want_commit r v t a | _ => true end   (* refusing is fine; rows must be the right ones *)
-         end
-o    if revdb_denotes r v then want_commit r v t a
-    else match (norm_base r (fst v), snd v) with
-         | (BBranch b, []) =>                         (* dirty branch: `db/branch` is the branch's working set *)
-           match branch_working r b with
-           | Some w => match assoc t (d_schema w) with
-                       | Some cols => ans_eqb a (ARows cols (rows_of t (d_data w)))
-                       | None => is_error a
-                       end
-           | None => is_error a
-           end
-         | _ => match a with ARows _ _ | AHist _ _ => want_commit r v t a | _ => true end   (* refusing is fine; rows must be the right ones *)
-         end
-o    if revdb_denotes r v then want_commit r v t a
-    else match (norm_base r (fst v), snd v) with
-         | (BBranch b, []) =>                         (* dirty branch: `db/branch` is the branch's working set *)
-           match branch_working r b with
-           | Some w => match assoc t (d_schema w) with
-                       | Some cols => ans_eqb a (ARows cols (rows_of t (d_data w)))
-                       | None => is_error a
-                       end
-           | None => is_error a
-           end
-         | _ => match a with ARows _ _ | AHist _ _ => want_commit r v t a | _ => true end   (* refusing is fine; rows must be the right ones *)
-         end
-l    if revdb_denotes r v then want_commit r v t a
-    else match (norm_base r (fst v), snd v) with
-         | (BBranch b, []) =>                         (* dirty branch: `db/branch` is the branch's working set *)
-           match branch_working r b with
-           | Some w => match assoc t (d_schema w) with
-                       | Some cols => ans_eqb a (ARows cols (rows_of t (d_data w)))
-                       | None => is_error a
-                       end
-           | None => is_error a
-           end
-         | _ => match a with ARows _ _ | AHist _ _ => want_commit r v t a | _ => true end   (* refusing is fine; rows must be the right ones *)
-         end
-.    if revdb_denotes r v then want_commit r v t a
-    else match (norm_base r (fst v), snd v) with
-         | (BBranch b, []) =>                         (* dirty branch: `db/branch` is the branch's working set *)
-           match branch_working r b with
-           | Some w => match assoc t (d_schema w) with
-                       | Some cols => ans_eqb a (ARows cols (rows_of t (d_data w)))
-                       | None => is_error a
-                       end
-           | None => is_error a
-           end
-         | _ => match a with ARows _ _ | AHist _ _ => want_commit r v t a | _ => true end   (* refusing is fine; rows must be the right ones *)
-         end
-
-    if revdb_denotes r v then want_commit r v t a
-    else match (norm_base r (fst v), snd v) with
-         | (BBranch b, []) =>                         (* dirty branch: `db/branch` is the branch's working set *)
-           match branch_working r b with
-           | Some w => match assoc t (d_schema w) with
-                       | Some cols => ans_eqb a (ARows cols (rows_of t (d_data w)))
-                       | None => is_error a
-                       end
-           | None => is_error a
-           end
-         | _ => match a with ARows _ _ | AHist _ _ => want_commit r v t a | _ => true end   (* refusing is fine; rows must be the right ones *)
-         end
-F    if revdb_denotes r v then want_commit r v t a
-    else match (norm_base r (fst v), snd v) with
-         | (BBranch b, []) =>                         (* dirty branch: `db/branch` is the branch's working set *)
-           match branch_working r b with
-           | Some w => match assoc t (d_schema w) with
-                       | Some cols => ans_eqb a (ARows cols (rows_of t (d_data w)))
-                       | None => is_error a
-                       end
-           | None => is_error a
-           end
-         | _ => match a with ARows _ _ | AHist _ _ => want_commit r v t a | _ => true end   (* refusing is fine; rows must be the right ones *)
-         end
-r    if revdb_denotes r v then want_commit r v t a
-    else match (norm_base r (fst v), snd v) with
-         | (BBranch b, []) =>                         (* dirty branch: `db/branch` is the branch's working set *)
-           match branch_working r b with
-           | Some w => match assoc t (d_schema w) with
-                       | Some cols => ans_eqb a (ARows cols (rows_of t (d_data w)))
-                       | None => is_error a
-                       end
-           | None => is_error a
-           end
-         | _ => match a with ARows _ _ | AHist _ _ => want_commit r v t a | _ => true end   (* refusing is fine; rows must be the right ones *)
-         end
-o    if revdb_denotes r v then want_commit r v t a
-    else match (norm_base r (fst v), snd v) with
-         | (BBranch b, []) =>                         (* dirty branch: `db/branch` is the branch's working set *)
-           match branch_working r b with
-           | Some w => match assoc t (d_schema w) with
-                       | Some cols => ans_eqb a (ARows cols (rows_of t (d_data w)))
-                       | None => is_error a
-                       end
-           | None => is_error a
-           end
-         | _ => match a with ARows _ _ | AHist _ _ => want_commit r v t a | _ => true end   (* refusing is fine; rows must be the right ones *)
-         end
-m    if revdb_denotes r v then want_commit r v t a
-    else match (norm_base r (fst v), snd v) with
-         | (BBranch b, []) =>                         (* dirty branch: `db/branch` is the branch's working set *)
-           match branch_working r b with
-           | Some w => match assoc t (d_schema w) with
-                       | Some cols => ans_eqb a (ARows cols (rows_of t (d_data w)))
-                       | None => is_error a
-                       end
-           | None => is_error a
-           end
-         | _ => match a with ARows _ _ | AHist _ _ => want_commit r v t a | _ => true end   (* refusing is fine; rows must be the right ones *)
-         end
-     if revdb_denotes r v then want_commit r v t a
-    else match (norm_base r (fst v), snd v) with
-         | (BBranch b, []) =>                         (* dirty branch: `db/branch` is the branch's working set *)
-           match branch_working r b with
-           | Some w => match assoc t (d_schema w) with
-                       | Some cols => ans_eqb a (ARows cols (rows_of t (d_data w)))
-                       | None => is_error a
-                       end
-           | None => is_error a
-           end
-         | _ => match a with ARows _ _ | AHist _ _ => want_commit r v t a | _ => true end   (* refusing is fine; rows must be the right ones *)
-         end
-D    if revdb_denotes r v then want_commit r v t a
-    else match (norm_base r (fst v), snd v) with
-         | (BBranch b, []) =>                         (* dirty branch: `db/branch` is the branch's working set *)
-           match branch_working r b with
-           | Some w => match assoc t (d_schema w) with
-                       | Some cols => ans_eqb a (ARows cols (rows_of t (d_data w)))
-                       | None => is_error a
-                       end
-           | None => is_error a
-           end
-         | _ => match a with ARows _ _ | AHist _ _ => want_commit r v t a | _ => true end   (* refusing is fine; rows must be the right ones *)
-         end
-o    if revdb_denotes r v then want_commit r v t a
-    else match (norm_base r (fst v), snd v) with
-         | (BBranch b, []) =>                         (* dirty branch: `db/branch` is the branch's working set *)
-           match branch_working r b with
-           | Some w => match assoc t (d_schema w) with
-                       | Some cols => ans_eqb a (ARows cols (rows_of t (d_data w)))
-                       | None => is_error a
-                       end
-           | None => is_error a
-           end
-         | _ => match a with ARows _ _ | AHist _ _ => want_commit r v t a | _ => true end   (* refusing is fine; rows must be the right ones *)
-         end
-l    if revdb_denotes r v then want_commit r v t a
-    else match (norm_base r (fst v), snd v) with
-         | (BBranch b, []) =>                         (* dirty branch: `db/branch` is the branch's working set *)
-           match branch_working r b with
-           | Some w => match assoc t (d_schema w) with
-                       | Some cols => ans_eqb a (ARows cols (rows_of t (d_data w)))
-                       | None => is_error a
-                       end
-           | None => is_error a
-           end
-         | _ => match a with ARows _ _ | AHist _ _ => want_commit r v t a | _ => true end   (* refusing is fine; rows must be the right ones *)
-         end
-t    if revdb_denotes r v then want_commit r v t a
-    else match (norm_base r (fst v), snd v) with
-         | (BBranch b, []) =>                         (* dirty branch: `db/branch` is the branch's working set *)
-           match branch_working r b with
-           | Some w => match assoc t (d_schema w) with
-                       | Some cols => ans_eqb a (ARows cols (rows_of t (d_data w)))
-                       | None => is_error a
-                       end
-           | None => is_error a
-           end
-         | _ => match a with ARows _ _ | AHist _ _ => want_commit r v t a | _ => true end   (* refusing is fine; rows must be the right ones *)
-         end
-     if revdb_denotes r v then want_commit r v t a
-    else match (norm_base r (fst v), snd v) with
-         | (BBranch b, []) =>                         (* dirty branch: `db/branch` is the branch's working set *)
-           match branch_working r b with
-           | Some w => match assoc t (d_schema w) with
-                       | Some cols => ans_eqb a (ARows cols (rows_of t (d_data w)))
-                       | None => is_error a
-                       end
-           | None => is_error a
-           end
-         | _ => match a with ARows _ _ | AHist _ _ => want_commit r v t a | _ => true end   (* refusing is fine; rows must be the right ones *)
-         end
-R    if revdb_denotes r v then want_commit r v t a
-    else match (norm_base r (fst v), snd v) with
-         | (BBranch b, []) =>                         (* dirty branch: `db/branch` is the branch's working set *)
-           match branch_working r b with
-           | Some w => match assoc t (d_schema w) with
-                       | Some cols => ans_eqb a (ARows cols (rows_of t (d_data w)))
-                       | None => is_error a
-                       end
-           | None => is_error a
-           end
-         | _ => match a with ARows _ _ | AHist _ _ => want_commit r v t a | _ => true end   (* refusing is fine; rows must be the right ones *)
-         end
-e    if revdb_denotes r v then want_commit r v t a
-    else match (norm_base r (fst v), snd v) with
-         | (BBranch b, []) =>                         (* dirty branch: `db/branch` is the branch's working set *)
-           match branch_working r b with
-           | Some w => match assoc t (d_schema w) with
-                       | Some cols => ans_eqb a (ARows cols (rows_of t (d_data w)))
-                       | None => is_error a
-                       end
-           | None => is_error a
-           end
-         | _ => match a with ARows _ _ | AHist _ _ => want_commit r v t a | _ => true end   (* refusing is fine; rows must be the right ones *)
-         end
-q    if revdb_denotes r v then want_commit r v t a
-    else match (norm_base r (fst v), snd v) with
-         | (BBranch b, []) =>                         (* dirty branch: `db/branch` is the branch's working set *)
-           match branch_working r b with
-           | Some w => match assoc t (d_schema w) with
-                       | Some cols => ans_eqb a (ARows cols (rows_of t (d_data w)))
-                       | None => is_error a
-                       end
-           | None => is_error a
-           end
-         | _ => match a with ARows _ _ | AHist _ _ => want_commit r v t a | _ => true end   (* refusing is fine; rows must be the right ones *)
-         end
-u    if revdb_denotes r v then want_commit r v t a
-    else match (norm_base r (fst v), snd v) with
-         | (BBranch b, []) =>                         (* dirty branch: `db/branch` is the branch's working set *)
-           match branch_working r b with
-           | Some w => match assoc t (d_schema w) with
-                       | Some cols => ans_eqb a (ARows cols (rows_of t (d_data w)))
-                       | None => is_error a
-                       end
-           | None => is_error a
-           end
-         | _ => match a with ARows _ _ | AHist _ _ => want_commit r v t a | _ => true end   (* refusing is fine; rows must be the right ones *)
-         end
-i    if revdb_denotes r v then want_commit r v t a
-    else match (norm_base r (fst v), snd v) with
-         | (BBranch b, []) =>                         (* dirty branch: `db/branch` is the branch's working set *)
-           match branch_working r b with
-           | Some w => match assoc t (d_schema w) with
-                       | Some cols => ans_eqb a (ARows cols (rows_of t (d_data w)))
-                       | None => is_error a
-                       end
-           | None => is_error a
-           end
-         | _ => match a with ARows _ _ | AHist _ _ => want_commit r v t a | _ => true end   (* refusing is fine; rows must be the right ones *)
-         end
-r    if revdb_denotes r v then want_commit r v t a
-    else match (norm_base r (fst v), snd v) with
-         | (BBranch b, []) =>                         (* dirty branch: `db/branch` is the branch's working set *)
-           match branch_working r b with
-           | Some w => match assoc t (d_schema w) with
-                       | Some cols => ans_eqb a (ARows cols (rows_of t (d_data w)))
-                       | None => is_error a
-                       end
-           | None => is_error a
-           end
-         | _ => match a with ARows _ _ | AHist _ _ => want_commit r v t a | _ => true end   (* refusing is fine; rows must be the right ones *)
-         end
-e    if revdb_denotes r v then want_commit r v t a
-    else match (norm_base r (fst v), snd v) with
-         | (BBranch b, []) =>                         (* dirty branch: `db/branch` is the branch's working set *)
-           match branch_working r b with
-           | Some w => match assoc t (d_schema w) with
-                       | Some cols => ans_eqb a (ARows cols (rows_of t (d_data w)))
-                       | None => is_error a
-                       end
-           | None => is_error a
-           end
-         | _ => match a with ARows _ _ | AHist _ _ => want_commit r v t a | _ => true end   (* refusing is fine; rows must be the right ones *)
-         end
-     if revdb_denotes r v then want_commit r v t a
-    else match (norm_base r (fst v), snd v) with
-         | (BBranch b, []) =>                         (* dirty branch: `db/branch` is the branch's working set *)
-           match branch_working r b with
-           | Some w => match assoc t (d_schema w) with
-                       | Some cols => ans_eqb a (ARows cols (rows_of t (d_data w)))
-                       | None => is_error a
-                       end
-           | None => is_error a
-           end
-         | _ => match a with ARows _ _ | AHist _ _ => want_commit r v t a | _ => true end   (* refusing is fine; rows must be the right ones *)
-         end
-I    if revdb_denotes r v then want_commit r v t a
-    else match (norm_base r (fst v), snd v) with
-         | (BBranch b, []) =>                         (* dirty branch: `db/branch` is the branch's working set *)
-           match branch_working r b with
-           | Some w => match assoc t (d_schema w) with
-                       | Some cols => ans_eqb a (ARows cols (rows_of t (d_data w)))
-                       | None => is_error a
-                       end
-           | None => is_error a
-           end
-         | _ => match a with ARows _ _ | AHist _ _ => want_commit r v t a | _ => true end   (* refusing is fine; rows must be the right ones *)
-         end
-m    if revdb_denotes r v then want_commit r v t a
-    else match (norm_base r (fst v), snd v) with
-         | (BBranch b, []) =>                         (* dirty branch: `db/branch` is the branch's working set *)
-           match branch_working r b with
-           | Some w => match assoc t (d_schema w) with
-                       | Some cols => ans_eqb a (ARows cols (rows_of t (d_data w)))
-                       | None => is_error a
-                       end
-           | None => is_error a
-           end
-         | _ => match a with ARows _ _ | AHist _ _ => want_commit r v t a | _ => true end   (* refusing is fine; rows must be the right ones *)
-         end
-p    if revdb_denotes r v then want_commit r v t a
-    else match (norm_base r (fst v), snd v) with
-         | (BBranch b, []) =>                         (* dirty branch: `db/branch` is the branch's working set *)
-           match branch_working r b with
-           | Some w => match assoc t (d_schema w) with
-                       | Some cols => ans_eqb a (ARows cols (rows_of t (d_data w)))
-                       | None => is_error a
-                       end
-           | None => is_error a
-           end
-         | _ => match a with ARows _ _ | AHist _ _ => want_commit r v t a | _ => true end   (* refusing is fine; rows must be the right ones *)
-         end
-o    if revdb_denotes r v then want_commit r v t a
-    else match (norm_base r (fst v), snd v) with
-         | (BBranch b, []) =>                         (* dirty branch: `db/branch` is the branch's working set *)
-           match branch_working r b with
-           | Some w => match assoc t (d_schema w) with
-                       | Some cols => ans_eqb a (ARows cols (rows_of t (d_data w)))
-                       | None => is_error a
-                       end
-           | None => is_error a
-           end
-         | _ => match a with ARows _ _ | AHist _ _ => want_commit r v t a | _ => true end   (* refusing is fine; rows must be the right ones *)
-         end
-r    if revdb_denotes r v then want_commit r v t a
-    else match (norm_base r (fst v), snd v) with
-         | (BBranch b, []) =>                         (* dirty branch: `db/branch` is the branch's working set *)
-           match branch_working r b with
-           | Some w => match assoc t (d_schema w) with
-                       | Some cols => ans_eqb a (ARows cols (rows_of t (d_data w)))
-                       | None => is_error a
-                       end
-           | None => is_error a
-           end
-         | _ => match a with ARows _ _ | AHist _ _ => want_commit r v t a | _ => true end   (* refusing is fine; rows must be the right ones *)
-         end
-t    if revdb_denotes r v then want_commit r v t a
-    else match (norm_base r (fst v), snd v) with
-         | (BBranch b, []) =>                         (* dirty branch: `db/branch` is the branch's working set *)
-           match branch_working r b with
-           | Some w => match assoc t (d_schema w) with
-                       | Some cols => ans_eqb a (ARows cols (rows_of t (d_data w)))
-                       | None => is_error a
-                       end
-           | None => is_error a
-           end
-         | _ => match a with ARows _ _ | AHist _ _ => want_commit r v t a | _ => true end   (* refusing is fine; rows must be the right ones *)
-         end
-     if revdb_denotes r v then want_commit r v t a
-    else match (norm_base r (fst v), snd v) with
-         | (BBranch b, []) =>                         (* dirty branch: `db/branch` is the branch's working set *)
-           match branch_working r b with
-           | Some w => match assoc t (d_schema w) with
-                       | Some cols => ans_eqb a (ARows cols (rows_of t (d_data w)))
-                       | None => is_error a
-                       end
-           | None => is_error a
-           end
-         | _ => match a with ARows _ _ | AHist _ _ => want_commit r v t a | _ => true end   (* refusing is fine; rows must be the right ones *)
-         end
-C    if revdb_denotes r v then want_commit r v t a
-    else match (norm_base r (fst v), snd v) with
-         | (BBranch b, []) =>                         (* dirty branch: `db/branch` is the branch's working set *)
-           match branch_working r b with
-           | Some w => match assoc t (d_schema w) with
-                       | Some cols => ans_eqb a (ARows cols (rows_of t (d_data w)))
-                       | None => is_error a
-                       end
-           | None => is_error a
-           end
-         | _ => match a with ARows _ _ | AHist _ _ => want_commit r v t a | _ => true end   (* refusing is fine; rows must be the right ones *)
-         end
-3    if revdb_denotes r v then want_commit r v t a
-    else match (norm_base r (fst v), snd v) with
-         | (BBranch b, []) =>                         (* dirty branch: `db/branch` is the branch's working set *)
-           match branch_working r b with
-           | Some w => match assoc t (d_schema w) with
-                       | Some cols => ans_eqb a (ARows cols (rows_of t (d_data w)))
-                       | None => is_error a
-                       end
-           | None => is_error a
-           end
-         | _ => match a with ARows _ _ | AHist _ _ => want_commit r v t a | _ => true end   (* refusing is fine; rows must be the right ones *)
-         end
-1    if revdb_denotes r v then want_commit r v t a
-    else match (norm_base r (fst v), snd v) with
-         | (BBranch b, []) =>                         (* dirty branch: `db/branch` is the branch's working set *)
-           match branch_working r b with
-           | Some w => match assoc t (d_schema w) with
-                       | Some cols => ans_eqb a (ARows cols (rows_of t (d_data w)))
-                       | None => is_error a
-                       end
-           | None => is_error a
-           end
-         | _ => match a with ARows _ _ | AHist _ _ => want_commit r v t a | _ => true end   (* refusing is fine; rows must be the right ones *)
-         end
-.    if revdb_denotes r v then want_commit r v t a
-    else match (norm_base r (fst v), snd v) with
-         | (BBranch b, []) =>                         (* dirty branch: `db/branch` is the branch's working set *)
-           match branch_working r b with
-           | Some w => match assoc t (d_schema w) with
-                       | Some cols => ans_eqb a (ARows cols (rows_of t (d_data w)))
-                       | None => is_error a
-                       end
-           | None => is_error a
-           end
-         | _ => match a with ARows _ _ | AHist _ _ => want_commit r v t a | _ => true end   (* refusing is fine; rows must be the right ones *)
-         end
-M    if revdb_denotes r v then want_commit r v t a
-    else match (norm_base r (fst v), snd v) with
-         | (BBranch b, []) =>                         (* dirty branch: `db/branch` is the branch's working set *)
-           match branch_working r b with
-           | Some w => match assoc t (d_schema w) with
-                       | Some cols => ans_eqb a (ARows cols (rows_of t (d_data w)))
-                       | None => is_error a
-                       end
-           | None => is_error a
-           end
-         | _ => match a with ARows _ _ | AHist _ _ => want_commit r v t a | _ => true end   (* refusing is fine; rows must be the right ones *)
-         end
-o    if revdb_denotes r v then want_commit r v t a
-    else match (norm_base r (fst v), snd v) with
-         | (BBranch b, []) =>                         (* dirty branch: `db/branch` is the branch's working set *)
-           match branch_working r b with
-           | Some w => match assoc t (d_schema w) with
-                       | Some cols => ans_eqb a (ARows cols (rows_of t (d_data w)))
-                       | None => is_error a
-                       end
-           | None => is_error a
-           end
-         | _ => match a with ARows _ _ | AHist _ _ => want_commit r v t a | _ => true end   (* refusing is fine; rows must be the right ones *)
-         end
-d    if revdb_denotes r v then want_commit r v t a
-    else match (norm_base r (fst v), snd v) with
-         | (BBranch b, []) =>                         (* dirty branch: `db/branch` is the branch's working set *)
-           match branch_working r b with
-           | Some w => match assoc t (d_schema w) with
-                       | Some cols => ans_eqb a (ARows cols (rows_of t (d_data w)))
-                       | None => is_error a
-                       end
-           | None => is_error a
-           end
-         | _ => match a with ARows _ _ | AHist _ _ => want_commit r v t a | _ => true end   (* refusing is fine; rows must be the right ones *)
-         end
-e    if revdb_denotes r v then want_commit r v t a
-    else match (norm_base r (fst v), snd v) with
-         | (BBranch b, []) =>                         (* dirty branch: `db/branch` is the branch's working set *)
-           match branch_working r b with
-           | Some w => match assoc t (d_schema w) with
-                       | Some cols => ans_eqb a (ARows cols (rows_of t (d_data w)))
-                       | None => is_error a
-                       end
-           | None => is_error a
-           end
-         | _ => match a with ARows _ _ | AHist _ _ => want_commit r v t a | _ => true end   (* refusing is fine; rows must be the right ones *)
-         end
-l    if revdb_denotes r v then want_commit r v t a
-    else match (norm_base r (fst v), snd v) with
-         | (BBranch b, []) =>                         (* dirty branch: `db/branch` is the branch's working set *)
-           match branch_working r b with
-           | Some w => match assoc t (d_schema w) with
-                       | Some cols => ans_eqb a (ARows cols (rows_of t (d_data w)))
-                       | None => is_error a
-                       end
-           | None => is_error a
-           end
-         | _ => match a with ARows _ _ | AHist _ _ => want_commit r v t a | _ => true end   (* refusing is fine; rows must be the right ones *)
-         end
-     if revdb_denotes r v then want_commit r v t a
-    else match (norm_base r (fst v), snd v) with
-         | (BBranch b, []) =>                         (* dirty branch: `db/branch` is the branch's working set *)
-           match branch_working r b with
-           | Some w => match assoc t (d_schema w) with
-                       | Some cols => ans_eqb a (ARows cols (rows_of t (d_data w)))
-                       | None => is_error a
-                       end
-           | None => is_error a
-           end
-         | _ => match a with ARows _ _ | AHist _ _ => want_commit r v t a | _ => true end   (* refusing is fine; rows must be the right ones *)
-         end
-C    if revdb_denotes r v then want_commit r v t a
-    else match (norm_base r (fst v), snd v) with
-         | (BBranch b, []) =>                         (* dirty branch: `db/branch` is the branch's working set *)
-           match branch_working r b with
-           | Some w => match assoc t (d_schema w) with
-                       | Some cols => ans_eqb a (ARows cols (rows_of t (d_data w)))
-                       | None => is_error a
-                       end
-           | None => is_error a
-           end
-         | _ => match a with ARows _ _ | AHist _ _ => want_commit r v t a | _ => true end   (* refusing is fine; rows must be the right ones *)
-         end
-3    if revdb_denotes r v then want_commit r v t a
-    else match (norm_base r (fst v), snd v) with
-         | (BBranch b, []) =>                         (* dirty branch: `db/branch` is the branch's working set *)
-           match branch_working r b with
-           | Some w => match assoc t (d_schema w) with
-                       | Some cols => ans_eqb a (ARows cols (rows_of t (d_data w)))
-                       | None => is_error a
-                       end
-           | None => is_error a
-           end
-         | _ => match a with ARows _ _ | AHist _ _ => want_commit r v t a | _ => true end   (* refusing is fine; rows must be the right ones *)
-         end
-3    if revdb_denotes r v then want_commit r v t a
-    else match (norm_base r (fst v), snd v) with
-         | (BBranch b, []) =>                         (* dirty branch: `db/branch` is the branch's working set *)
-           match branch_working r b with
-           | Some w => match assoc t (d_schema w) with
-                       | Some cols => ans_eqb a (ARows cols (rows_of t (d_data w)))
-                       | None => is_error a
-                       end
-           | None => is_error a
-           end
-         | _ => match a with ARows _ _ | AHist _ _ => want_commit r v t a | _ => true end   (* refusing is fine; rows must be the right ones *)
-         end
-.    if revdb_denotes r v then want_commit r v t a
-    else match (norm_base r (fst v), snd v) with
-         | (BBranch b, []) =>                         (* dirty branch: `db/branch` is the branch's working set *)
-           match branch_working r b with
-           | Some w => match assoc t (d_schema w) with
-                       | Some cols => ans_eqb a (ARows cols (rows_of t (d_data w)))
-                       | None => is_error a
-                       end
-           | None => is_error a
-           end
-         | _ => match a with ARows _ _ | AHist _ _ => want_commit r v t a | _ => true end   (* refusing is fine; rows must be the right ones *)
-         end
-M    if revdb_denotes r v then want_commit r v t a
-    else match (norm_base r (fst v), snd v) with
-         | (BBranch b, []) =>                         (* dirty branch: `db/branch` is the branch's working set *)
-           match branch_working r b with
-           | Some w => match assoc t (d_schema w) with
-                       | Some cols => ans_eqb a (ARows cols (rows_of t (d_data w)))
-                       | None => is_error a
-                       end
-           | None => is_error a
-           end
-         | _ => match a with ARows _ _ | AHist _ _ => want_commit r v t a | _ => true end   (* refusing is fine; rows must be the right ones *)
-         end
-o    if revdb_denotes r v then want_commit r v t a
-    else match (norm_base r (fst v), snd v) with
-         | (BBranch b, []) =>                         (* dirty branch: `db/branch` is the branch's working set *)
-           match branch_working r b with
-           | Some w => match assoc t (d_schema w) with
-                       | Some cols => ans_eqb a (ARows cols (rows_of t (d_data w)))
-                       | None => is_error a
-                       end
-           | None => is_error a
-           end
-         | _ => match a with ARows _ _ | AHist _ _ => want_commit r v t a | _ => true end   (* refusing is fine; rows must be the right ones *)
-         end
-d    if revdb_denotes r v then want_commit r v t a
-    else match (norm_base r (fst v), snd v) with
-         | (BBranch b, []) =>                         (* dirty branch: `db/branch` is the branch's working set *)
-           match branch_working r b with
-           | Some w => match assoc t (d_schema w) with
-                       | Some cols => ans_eqb a (ARows cols (rows_of t (d_data w)))
-                       | None => is_error a
-                       end
-           | None => is_error a
-           end
-         | _ => match a with ARows _ _ | AHist _ _ => want_commit r v t a | _ => true end   (* refusing is fine; rows must be the right ones *)
-         end
-e    if revdb_denotes r v then want_commit r v t a
-    else match (norm_base r (fst v), snd v) with
-         | (BBranch b, []) =>                         (* dirty branch: `db/branch` is the branch's working set *)
-           match branch_working r b with
-           | Some w => match assoc t (d_schema w) with
-                       | Some cols => ans_eqb a (ARows cols (rows_of t (d_data w)))
-                       | None => is_error a
-                       end
-           | None => is_error a
-           end
-         | _ => match a with ARows _ _ | AHist _ _ => want_commit r v t a | _ => true end   (* refusing is fine; rows must be the right ones *)
-         end
-l    if revdb_denotes r v then want_commit r v t a
-    else match (norm_base r (fst v), snd v) with
-         | (BBranch b, []) =>                         (* dirty branch: `db/branch` is the branch's working set *)
-           match branch_working r b with
-           | Some w => match assoc t (d_schema w) with
-                       | Some cols => ans_eqb a (ARows cols (rows_of t (d_data w)))
-                       | None => is_error a
-                       end
-           | None => is_error a
-           end
-         | _ => match a with ARows _ _ | AHist _ _ => want_commit r v t a | _ => true end   (* refusing is fine; rows must be the right ones *)
-         end
-     if revdb_denotes r v then want_commit r v t a
-    else match (norm_base r (fst v), snd v) with
-         | (BBranch b, []) =>                         (* dirty branch: `db/branch` is the branch's working set *)
-           match branch_working r b with
-           | Some w => match assoc t (d_schema w) with
-                       | Some cols => ans_eqb a (ARows cols (rows_of t (d_data w)))
-                       | None => is_error a
-                       end
-           | None => is_error a
-           end
-         | _ => match a with ARows _ _ | AHist _ _ => want_commit r v t a | _ => true end   (* refusing is fine; rows must be the right ones *)
-         end
-C    if revdb_denotes r v then want_commit r v t a
-    else match (norm_base r (fst v), snd v) with
-         | (BBranch b, []) =>                         (* dirty branch: `db/branch` is the branch's working set *)
-           match branch_working r b with
-           | Some w => match assoc t (d_schema w) with
-                       | Some cols => ans_eqb a (ARows cols (rows_of t (d_data w)))
-                       | None => is_error a
-                       end
-           | None => is_error a
-           end
-         | _ => match a with ARows _ _ | AHist _ _ => want_commit r v t a | _ => true end   (* refusing is fine; rows must be the right ones *)
-         end
-3    if revdb_denotes r v then want_commit r v t a
-    else match (norm_base r (fst v), snd v) with
-         | (BBranch b, []) =>                         (* dirty branch: `db/branch` is the branch's working set *)
-           match branch_working r b with
-           | Some w => match assoc t (d_schema w) with
-                       | Some cols => ans_eqb a (ARows cols (rows_of t (d_data w)))
-                       | None => is_error a
-                       end
-           | None => is_error a
-           end
-         | _ => match a with ARows _ _ | AHist _ _ => want_commit r v t a | _ => true end   (* refusing is fine; rows must be the right ones *)
-         end
-3    if revdb_denotes r v then want_commit r v t a
-    else match (norm_base r (fst v), snd v) with
-         | (BBranch b, []) =>                         (* dirty branch: `db/branch` is the branch's working set *)
-           match branch_working r b with
-           | Some w => match assoc t (d_schema w) with
-                       | Some cols => ans_eqb a (ARows cols (rows_of t (d_data w)))
-                       | None => is_error a
-                       end
-           | None => is_error a
-           end
-         | _ => match a with ARows _ _ | AHist _ _ => want_commit r v t a | _ => true end   (* refusing is fine; rows must be the right ones *)
-         end
-.    if revdb_denotes r v then want_commit r v t a
-    else match (norm_base r (fst v), snd v) with
-         | (BBranch b, []) =>                         (* dirty branch: `db/branch` is the branch's working set *)
-           match branch_working r b with
-           | Some w => match assoc t (d_schema w) with
-                       | Some cols => ans_eqb a (ARows cols (rows_of t (d_data w)))
-                       | None => is_error a
-                       end
-           | None => is_error a
-           end
-         | _ => match a with ARows _ _ | AHist _ _ => want_commit r v t a | _ => true end   (* refusing is fine; rows must be the right ones *)
-         end
-S    if revdb_denotes r v then want_commit r v t a
-    else match (norm_base r (fst v), snd v) with
-         | (BBranch b, []) =>                         (* dirty branch: `db/branch` is the branch's working set *)
-           match branch_working r b with
-           | Some w => match assoc t (d_schema w) with
-                       | Some cols => ans_eqb a (ARows cols (rows_of t (d_data w)))
-                       | None => is_error a
-                       end
-           | None => is_error a
-           end
-         | _ => match a with ARows _ _ | AHist _ _ => want_commit r v t a | _ => true end   (* refusing is fine; rows must be the right ones *)
-         end
-p    if revdb_denotes r v then want_commit r v t a
-    else match (norm_base r (fst v), snd v) with
-         | (BBranch b, []) =>                         (* dirty branch: `db/branch` is the branch's working set *)
-           match branch_working r b with
-           | Some w => match assoc t (d_schema w) with
-                       | Some cols => ans_eqb a (ARows cols (rows_of t (d_data w)))
-                       | None => is_error a
-                       end
-           | None => is_error a
-           end
-         | _ => match a with ARows _ _ | AHist _ _ => want_commit r v t a | _ => true end   (* refusing is fine; rows must be the right ones *)
-         end
-e    if revdb_denotes r v then want_commit r v t a
-    else match (norm_base r (fst v), snd v) with
-         | (BBranch b, []) =>                         (* dirty branch: `db/branch` is the branch's working set *)
-           match branch_working r b with
-           | Some w => match assoc t (d_schema w) with
-                       | Some cols => ans_eqb a (ARows cols (rows_of t (d_data w)))
-                       | None => is_error a
-                       end
-           | None => is_error a
-           end
-         | _ => match a with ARows _ _ | AHist _ _ => want_commit r v t a | _ => true end   (* refusing is fine; rows must be the right ones *)
-         end
-c    if revdb_denotes r v then want_commit r v t a
-    else match (norm_base r (fst v), snd v) with
-         | (BBranch b, []) =>                         (* dirty branch: `db/branch` is the branch's working set *)
-           match branch_working r b with
-           | Some w => match assoc t (d_schema w) with
-                       | Some cols => ans_eqb a (ARows cols (rows_of t (d_data w)))
-                       | None => is_error a
-                       end
-           | None => is_error a
-           end
-         | _ => match a with ARows _ _ | AHist _ _ => want_commit r v t a | _ => true end   (* refusing is fine; rows must be the right ones *)
-         end
-.    if revdb_denotes r v then want_commit r v t a
-    else match (norm_base r (fst v), snd v) with
-         | (BBranch b, []) =>                         (* dirty branch: `db/branch` is the branch's working set *)
-           match branch_working r b with
-           | Some w => match assoc t (d_schema w) with
-                       | Some cols => ans_eqb a (ARows cols (rows_of t (d_data w)))
-                       | None => is_error a
-                       end
-           | None => is_error a
-           end
-         | _ => match a with ARows _ _ | AHist _ _ => want_commit r v t a | _ => true end   (* refusing is fine; rows must be the right ones *)
-         end
-
-    if revdb_denotes r v then want_commit r v t a
-    else match (norm_base r (fst v), snd v) with
-         | (BBranch b, []) =>                         (* dirty branch: `db/branch` is the branch's working set *)
-           match branch_working r b with
-           | Some w => match assoc t (d_schema w) with
-                       | Some cols => ans_eqb a (ARows cols (rows_of t (d_data w)))
-                       | None => is_error a
-                       end
-           | None => is_error a
-           end
-         | _ => match a with ARows _ _ | AHist _ _ => want_commit r v t a | _ => true end   (* refusing is fine; rows must be the right ones *)
-         end
-I    if revdb_denotes r v then want_commit r v t a
-    else match (norm_base r (fst v), snd v) with
-         | (BBranch b, []) =>                         (* dirty branch: `db/branch` is the branch's working set *)
-           match branch_working r b with
-           | Some w => match assoc t (d_schema w) with
-                       | Some cols => ans_eqb a (ARows cols (rows_of t (d_data w)))
-                       | None => is_error a
-                       end
-           | None => is_error a
-           end
-         | _ => match a with ARows _ _ | AHist _ _ => want_commit r v t a | _ => true end   (* refusing is fine; rows must be the right ones *)
-         end
-m    if revdb_denotes r v then want_commit r v t a
-    else match (norm_base r (fst v), snd v) with
-         | (BBranch b, []) =>                         (* dirty branch: `db/branch` is the branch's working set *)
-           match branch_working r b with
-           | Some w => match assoc t (d_schema w) with
-                       | Some cols => ans_eqb a (ARows cols (rows_of t (d_data w)))
-                       | None => is_error a
-                       end
-           | None => is_error a
-           end
-         | _ => match a with ARows _ _ | AHist _ _ => want_commit r v t a | _ => true end   (* refusing is fine; rows must be the right ones *)
-         end
-p    if revdb_denotes r v then want_commit r v t a
-    else match (norm_base r (fst v), snd v) with
-         | (BBranch b, []) =>                         (* dirty branch: `db/branch` is the branch's working set *)
-           match branch_working r b with
-           | Some w => match assoc t (d_schema w) with
-                       | Some cols => ans_eqb a (ARows cols (rows_of t (d_data w)))
-                       | None => is_error a
-                       end
-           | None => is_error a
-           end
-         | _ => match a with ARows _ _ | AHist _ _ => want_commit r v t a | _ => true end   (* refusing is fine; rows must be the right ones *)
-         end
-o    if revdb_denotes r v then want_commit r v t a
-    else match (norm_base r (fst v), snd v) with
-         | (BBranch b, []) =>                         (* dirty branch: `db/branch` is the branch's working set *)
-           match branch_working r b with
-           | Some w => match assoc t (d_schema w) with
-                       | Some cols => ans_eqb a (ARows cols (rows_of t (d_data w)))
-                       | None => is_error a
-                       end
-           | None => is_error a
-           end
-         | _ => match a with ARows _ _ | AHist _ _ => want_commit r v t a | _ => true end   (* refusing is fine; rows must be the right ones *)
-         end
-r    if revdb_denotes r v then want_commit r v t a
-    else match (norm_base r (fst v), snd v) with
-         | (BBranch b, []) =>                         (* dirty branch: `db/branch` is the branch's working set *)
-           match branch_working r b with
-           | Some w => match assoc t (d_schema w) with
-                       | Some cols => ans_eqb a (ARows cols (rows_of t (d_data w)))
-                       | None => is_error a
-                       end
-           | None => is_error a
-           end
-         | _ => match a with ARows _ _ | AHist _ _ => want_commit r v t a | _ => true end   (* refusing is fine; rows must be the right ones *)
-         end
-t    if revdb_denotes r v then want_commit r v t a
-    else match (norm_base r (fst v), snd v) with
-         | (BBranch b, []) =>                         (* dirty branch: `db/branch` is the branch's working set *)
-           match branch_working r b with
-           | Some w => match assoc t (d_schema w) with
-                       | Some cols => ans_eqb a (ARows cols (rows_of t (d_data w)))
-                       | None => is_error a
-                       end
-           | None => is_error a
-           end
-         | _ => match a with ARows _ _ | AHist _ _ => want_commit r v t a | _ => true end   (* refusing is fine; rows must be the right ones *)
-         end
-     if revdb_denotes r v then want_commit r v t a
-    else match (norm_base r (fst v), snd v) with
-         | (BBranch b, []) =>                         (* dirty branch: `db/branch` is the branch's working set *)
-           match branch_working r b with
-           | Some w => match assoc t (d_schema w) with
-                       | Some cols => ans_eqb a (ARows cols (rows_of t (d_data w)))
-                       | None => is_error a
-                       end
-           | None => is_error a
-           end
-         | _ => match a with ARows _ _ | AHist _ _ => want_commit r v t a | _ => true end   (* refusing is fine; rows must be the right ones *)
-         end
-L    if revdb_denotes r v then want_commit r v t a
-    else match (norm_base r (fst v), snd v) with
-         | (BBranch b, []) =>                         (* dirty branch: `db/branch` is the branch's working set *)
-           match branch_working r b with
-           | Some w => match assoc t (d_schema w) with
-                       | Some cols => ans_eqb a (ARows cols (rows_of t (d_data w)))
-                       | None => is_error a
-                       end
-           | None => is_error a
-           end
-         | _ => match a with ARows _ _ | AHist _ _ => want_commit r v t a | _ => true end   (* refusing is fine; rows must be the right ones *)
-         end
-i    if revdb_denotes r v then want_commit r v t a
-    else match (norm_base r (fst v), snd v) with
-         | (BBranch b, []) =>                         (* dirty branch: `db/branch` is the branch's working set *)
-           match branch_working r b with
-           | Some w => match assoc t (d_schema w) with
-                       | Some cols => ans_eqb a (ARows cols (rows_of t (d_data w)))
-                       | None => is_error a
-                       end
-           | None => is_error a
-           end
-         | _ => match a with ARows _ _ | AHist _ _ => want_commit r v t a | _ => true end   (* refusing is fine; rows must be the right ones *)
-         end
-s    if revdb_denotes r v then want_commit r v t a
-    else match (norm_base r (fst v), snd v) with
-         | (BBranch b, []) =>                         (* dirty branch: `db/branch` is the branch's working set *)
-           match branch_working r b with
-           | Some w => match assoc t (d_schema w) with
-                       | Some cols => ans_eqb a (ARows cols (rows_of t (d_data w)))
-                       | None => is_error a
-                       end
-           | None => is_error a
-           end
-         | _ => match a with ARows _ _ | AHist _ _ => want_commit r v t a | _ => true end   (* refusing is fine; rows must be the right ones *)
-         end
-t    if revdb_denotes r v then want_commit r v t a
-    else match (norm_base r (fst v), snd v) with
-         | (BBranch b, []) =>                         (* dirty branch: `db/branch` is the branch's working set *)
-           match branch_working r b with
-           | Some w => match assoc t (d_schema w) with
-                       | Some cols => ans_eqb a (ARows cols (rows_of t (d_data w)))
-                       | None => is_error a
-                       end
-           | None => is_error a
-           end
-         | _ => match a with ARows _ _ | AHist _ _ => want_commit r v t a | _ => true end   (* refusing is fine; rows must be the right ones *)
-         end
-N    if revdb_denotes r v then want_commit r v t a
-    else match (norm_base r (fst v), snd v) with
-         | (BBranch b, []) =>                         (* dirty branch: `db/branch` is the branch's working set *)
-           match branch_working r b with
-           | Some w => match assoc t (d_schema w) with
-                       | Some cols => ans_eqb a (ARows cols (rows_of t (d_data w)))
-                       | None => is_error a
-                       end
-           | None => is_error a
-           end
-         | _ => match a with ARows _ _ | AHist _ _ => want_commit r v t a | _ => true end   (* refusing is fine; rows must be the right ones *)
-         end
-o    if revdb_denotes r v then want_commit r v t a
-    else match (norm_base r (fst v), snd v) with
-         | (BBranch b, []) =>                         (* dirty branch: `db/branch` is the branch's working set *)
-           match branch_working r b with
-           | Some w => match assoc t (d_schema w) with
-                       | Some cols => ans_eqb a (ARows cols (rows_of t (d_data w)))
-                       | None => is_error a
-                       end
-           | None => is_error a
-           end
-         | _ => match a with ARows _ _ | AHist _ _ => want_commit r v t a | _ => true end   (* refusing is fine; rows must be the right ones *)
-         end
-t    if revdb_denotes r v then want_commit r v t a
-    else match (norm_base r (fst v), snd v) with
-         | (BBranch b, []) =>                         (* dirty branch: `db/branch` is the branch's working set *)
-           match branch_working r b with
-           | Some w => match assoc t (d_schema w) with
-                       | Some cols => ans_eqb a (ARows cols (rows_of t (d_data w)))
-                       | None => is_error a
-                       end
-           | None => is_error a
-           end
-         | _ => match a with ARows _ _ | AHist _ _ => want_commit r v t a | _ => true end   (* refusing is fine; rows must be the right ones *)
-         end
-a    if revdb_denotes r v then want_commit r v t a
-    else match (norm_base r (fst v), snd v) with
-         | (BBranch b, []) =>                         (* dirty branch: `db/branch` is the branch's working set *)
-           match branch_working r b with
-           | Some w => match assoc t (d_schema w) with
-                       | Some cols => ans_eqb a (ARows cols (rows_of t (d_data w)))
-                       | None => is_error a
-                       end
-           | None => is_error a
-           end
-         | _ => match a with ARows _ _ | AHist _ _ => want_commit r v t a | _ => true end   (* refusing is fine; rows must be the right ones *)
-         end
-t    if revdb_denotes r v then want_commit r v t a
-    else match (norm_base r (fst v), snd v) with
-         | (BBranch b, []) =>                         (* dirty branch: `db/branch` is the branch's working set *)
-           match branch_working r b with
-           | Some w => match assoc t (d_schema w) with
-                       | Some cols => ans_eqb a (ARows cols (rows_of t (d_data w)))
-                       | None => is_error a
-                       end
-           | None => is_error a
-           end
-         | _ => match a with ARows _ _ | AHist _ _ => want_commit r v t a | _ => true end   (* refusing is fine; rows must be the right ones *)
-         end
-i    if revdb_denotes r v then want_commit r v t a
-    else match (norm_base r (fst v), snd v) with
-         | (BBranch b, []) =>                         (* dirty branch: `db/branch` is the branch's working set *)
-           match branch_working r b with
-           | Some w => match assoc t (d_schema w) with
-                       | Some cols => ans_eqb a (ARows cols (rows_of t (d_data w)))
-                       | None => is_error a
-                       end
-           | None => is_error a
-           end
-         | _ => match a with ARows _ _ | AHist _ _ => want_commit r v t a | _ => true end   (* refusing is fine; rows must be the right ones *)
-         end
-o    if revdb_denotes r v then want_commit r v t a
-    else match (norm_base r (fst v), snd v) with
-         | (BBranch b, []) =>                         (* dirty branch: `db/branch` is the branch's working set *)
-           match branch_working r b with
-           | Some w => match assoc t (d_schema w) with
-                       | Some cols => ans_eqb a (ARows cols (rows_of t (d_data w)))
-                       | None => is_error a
-                       end
-           | None => is_error a
-           end
-         | _ => match a with ARows _ _ | AHist _ _ => want_commit r v t a | _ => true end   (* refusing is fine; rows must be the right ones *)
-         end
-n    if revdb_denotes r v then want_commit r v t a
-    else match (norm_base r (fst v), snd v) with
-         | (BBranch b, []) =>                         (* dirty branch: `db/branch` is the branch's working set *)
-           match branch_working r b with
-           | Some w => match assoc t (d_schema w) with
-                       | Some cols => ans_eqb a (ARows cols (rows_of t (d_data w)))
-                       | None => is_error a
-                       end
-           | None => is_error a
-           end
-         | _ => match a with ARows _ _ | AHist _ _ => want_commit r v t a | _ => true end   (* refusing is fine; rows must be the right ones *)
-         end
-s    if revdb_denotes r v then want_commit r v t a
-    else match (norm_base r (fst v), snd v) with
-         | (BBranch b, []) =>                         (* dirty branch: `db/branch` is the branch's working set *)
-           match branch_working r b with
-           | Some w => match assoc t (d_schema w) with
-                       | Some cols => ans_eqb a (ARows cols (rows_of t (d_data w)))
-                       | None => is_error a
-                       end
-           | None => is_error a
-           end
-         | _ => match a with ARows _ _ | AHist _ _ => want_commit r v t a | _ => true end   (* refusing is fine; rows must be the right ones *)
-         end
-.    if revdb_denotes r v then want_commit r v t a
-    else match (norm_base r (fst v), snd v) with
-         | (BBranch b, []) =>                         (* dirty branch: `db/branch` is the branch's working set *)
-           match branch_working r b with
-           | Some w => match assoc t (d_schema w) with
-                       | Some cols => ans_eqb a (ARows cols (rows_of t (d_data w)))
-                       | None => is_error a
-                       end
-           | None => is_error a
-           end
-         | _ => match a with ARows _ _ | AHist _ _ => want_commit r v t a | _ => true end   (* refusing is fine; rows must be the right ones *)
-         end
-
-    if revdb_denotes r v then want_commit r v t a
-    else match (norm_base r (fst v), snd v) with
-         | (BBranch b, []) =>                         (* dirty branch: `db/branch` is the branch's working set *)
-           match branch_working r b with
-           | Some w => match assoc t (d_schema w) with
-                       | Some cols => ans_eqb a (ARows cols (rows_of t (d_data w)))
-                       | None => is_error a
-                       end
-           | None => is_error a
-           end
-         | _ => match a with ARows _ _ | AHist _ _ => want_commit r v t a | _ => true end   (* refusing is fine; rows must be the right ones *)
-         end
-L    if revdb_denotes r v then want_commit r v t a
-    else match (norm_base r (fst v), snd v) with
-         | (BBranch b, []) =>                         (* dirty branch: `db/branch` is the branch's working set *)
-           match branch_working r b with
-           | Some w => match assoc t (d_schema w) with
-                       | Some cols => ans_eqb a (ARows cols (rows_of t (d_data w)))
-                       | None => is_error a
-                       end
-           | None => is_error a
-           end
-         | _ => match a with ARows _ _ | AHist _ _ => want_commit r v t a | _ => true end   (* refusing is fine; rows must be the right ones *)
-         end
-o    if revdb_denotes r v then want_commit r v t a
-    else match (norm_base r (fst v), snd v) with
-         | (BBranch b, []) =>                         (* dirty branch: `db/branch` is the branch's working set *)
-           match branch_working r b with
-           | Some w => match assoc t (d_schema w) with
-                       | Some cols => ans_eqb a (ARows cols (rows_of t (d_data w)))
-                       | None => is_error a
-                       end
-           | None => is_error a
-           end
-         | _ => match a with ARows _ _ | AHist _ _ => want_commit r v t a | _ => true end   (* refusing is fine; rows must be the right ones *)
-         end
-c    if revdb_denotes r v then want_commit r v t a
-    else match (norm_base r (fst v), snd v) with
-         | (BBranch b, []) =>                         (* dirty branch: `db/branch` is the branch's working set *)
-           match branch_working r b with
-           | Some w => match assoc t (d_schema w) with
-                       | Some cols => ans_eqb a (ARows cols (rows_of t (d_data w)))
-                       | None => is_error a
-                       end
-           | None => is_error a
-           end
-         | _ => match a with ARows _ _ | AHist _ _ => want_commit r v t a | _ => true end   (* refusing is fine; rows must be the right ones *)
-         end
-a    if revdb_denotes r v then want_commit r v t a
-    else match (norm_base r (fst v), snd v) with
-         | (BBranch b, []) =>                         (* dirty branch: `db/branch` is the branch's working set *)
-           match branch_working r b with
-           | Some w => match assoc t (d_schema w) with
-                       | Some cols => ans_eqb a (ARows cols (rows_of t (d_data w)))
-                       | None => is_error a
-                       end
-           | None => is_error a
-           end
-         | _ => match a with ARows _ _ | AHist _ _ => want_commit r v t a | _ => true end   (* refusing is fine; rows must be the right ones *)
-         end
-l    if revdb_denotes r v then want_commit r v t a
-    else match (norm_base r (fst v), snd v) with
-         | (BBranch b, []) =>                         (* dirty branch: `db/branch` is the branch's working set *)
-           match branch_working r b with
-           | Some w => match assoc t (d_schema w) with
-                       | Some cols => ans_eqb a (ARows cols (rows_of t (d_data w)))
-                       | None => is_error a
-                       end
-           | None => is_error a
-           end
-         | _ => match a with ARows _ _ | AHist _ _ => want_commit r v t a | _ => true end   (* refusing is fine; rows must be the right ones *)
-         end
-     if revdb_denotes r v then want_commit r v t a
-    else match (norm_base r (fst v), snd v) with
-         | (BBranch b, []) =>                         (* dirty branch: `db/branch` is the branch's working set *)
-           match branch_working r b with
-           | Some w => match assoc t (d_schema w) with
-                       | Some cols => ans_eqb a (ARows cols (rows_of t (d_data w)))
-                       | None => is_error a
-                       end
-           | None => is_error a
-           end
-         | _ => match a with ARows _ _ | AHist _ _ => want_commit r v t a | _ => true end   (* refusing is fine; rows must be the right ones *)
-         end
-O    if revdb_denotes r v then want_commit r v t a
-    else match (norm_base r (fst v), snd v) with
-         | (BBranch b, []) =>                         (* dirty branch: `db/branch` is the branch's working set *)
-           match branch_working r b with
-           | Some w => match assoc t (d_schema w) with
-                       | Some cols => ans_eqb a (ARows cols (rows_of t (d_data w)))
-                       | None => is_error a
-                       end
-           | None => is_error a
-           end
-         | _ => match a with ARows _ _ | AHist _ _ => want_commit r v t a | _ => true end   (* refusing is fine; rows must be the right ones *)
-         end
-p    if revdb_denotes r v then want_commit r v t a
-    else match (norm_base r (fst v), snd v) with
-         | (BBranch b, []) =>                         (* dirty branch: `db/branch` is the branch's working set *)
-           match branch_working r b with
-           | Some w => match assoc t (d_schema w) with
-                       | Some cols => ans_eqb a (ARows cols (rows_of t (d_data w)))
-                       | None => is_error a
-                       end
-           | None => is_error a
-           end
-         | _ => match a with ARows _ _ | AHist _ _ => want_commit r v t a | _ => true end   (* refusing is fine; rows must be the right ones *)
-         end
-e    if revdb_denotes r v then want_commit r v t a
-    else match (norm_base r (fst v), snd v) with
-         | (BBranch b, []) =>                         (* dirty branch: `db/branch` is the branch's working set *)
-           match branch_working r b with
-           | Some w => match assoc t (d_schema w) with
-                       | Some cols => ans_eqb a (ARows cols (rows_of t (d_data w)))
-                       | None => is_error a
-                       end
-           | None => is_error a
-           end
-         | _ => match a with ARows _ _ | AHist _ _ => want_commit r v t a | _ => true end   (* refusing is fine; rows must be the right ones *)
-         end
-n    if revdb_denotes r v then want_commit r v t a
-    else match (norm_base r (fst v), snd v) with
-         | (BBranch b, []) =>                         (* dirty branch: `db/branch` is the branch's working set *)
-           match branch_working r b with
-           | Some w => match assoc t (d_schema w) with
-                       | Some cols => ans_eqb a (ARows cols (rows_of t (d_data w)))
-                       | None => is_error a
-                       end
-           | None => is_error a
-           end
-         | _ => match a with ARows _ _ | AHist _ _ => want_commit r v t a | _ => true end   (* refusing is fine; rows must be the right ones *)
-         end
-     if revdb_denotes r v then want_commit r v t a
-    else match (norm_base r (fst v), snd v) with
-         | (BBranch b, []) =>                         (* dirty branch: `db/branch` is the branch's working set *)
-           match branch_working r b with
-           | Some w => match assoc t (d_schema w) with
-                       | Some cols => ans_eqb a (ARows cols (rows_of t (d_data w)))
-                       | None => is_error a
-                       end
-           | None => is_error a
-           end
-         | _ => match a with ARows _ _ | AHist _ _ => want_commit r v t a | _ => true end   (* refusing is fine; rows must be the right ones *)
-         end
-S    if revdb_denotes r v then want_commit r v t a
-    else match (norm_base r (fst v), snd v) with
-         | (BBranch b, []) =>                         (* dirty branch: `db/branch` is the branch's working set *)
-           match branch_working r b with
-           | Some w => match assoc t (d_schema w) with
-                       | Some cols => ans_eqb a (ARows cols (rows_of t (d_data w)))
-                       | None => is_error a
-                       end
-           | None => is_error a
-           end
-         | _ => match a with ARows _ _ | AHist _ _ => want_commit r v t a | _ => true end   (* refusing is fine; rows must be the right ones *)
-         end
-c    if revdb_denotes r v then want_commit r v t a
-    else match (norm_base r (fst v), snd v) with
-         | (BBranch b, []) =>                         (* dirty branch: `db/branch` is the branch's working set *)
-           match branch_working r b with
-           | Some w => match assoc t (d_schema w) with
-                       | Some cols => ans_eqb a (ARows cols (rows_of t (d_data w)))
-                       | None => is_error a
-                       end
-           | None => is_error a
-           end
-         | _ => match a with ARows _ _ | AHist _ _ => want_commit r v t a | _ => true end   (* refusing is fine; rows must be the right ones *)
-         end
-o    if revdb_denotes r v then want_commit r v t a
-    else match (norm_base r (fst v), snd v) with
-         | (BBranch b, []) =>                         (* dirty branch: `db/branch` is the branch's working set *)
-           match branch_working r b with
-           | Some w => match assoc t (d_schema w) with
-                       | Some cols => ans_eqb a (ARows cols (rows_of t (d_data w)))
-                       | None => is_error a
-                       end
-           | None => is_error a
-           end
-         | _ => match a with ARows _ _ | AHist _ _ => want_commit r v t a | _ => true end   (* refusing is fine; rows must be the right ones *)
-         end
-p    if revdb_denotes r v then want_commit r v t a
-    else match (norm_base r (fst v), snd v) with
-         | (BBranch b, []) =>                         (* dirty branch: `db/branch` is the branch's working set *)
-           match branch_working r b with
-           | Some w => match assoc t (d_schema w) with
-                       | Some cols => ans_eqb a (ARows cols (rows_of t (d_data w)))
-                       | None => is_error a
-                       end
-           | None => is_error a
-           end
-         | _ => match a with ARows _ _ | AHist _ _ => want_commit r v t a | _ => true end   (* refusing is fine; rows must be the right ones *)
-         end
-e    if revdb_denotes r v then want_commit r v t a
-    else match (norm_base r (fst v), snd v) with
-         | (BBranch b, []) =>                         (* dirty branch: `db/branch` is the branch's working set *)
-           match branch_working r b with
-           | Some w => match assoc t (d_schema w) with
-                       | Some cols => ans_eqb a (ARows cols (rows_of t (d_data w)))
-                       | None => is_error a
-                       end
-           | None => is_error a
-           end
-         | _ => match a with ARows _ _ | AHist _ _ => want_commit r v t a | _ => true end   (* refusing is fine; rows must be the right ones *)
-         end
-     if revdb_denotes r v then want_commit r v t a
-    else match (norm_base r (fst v), snd v) with
-         | (BBranch b, []) =>                         (* dirty branch: `db/branch` is the branch's working set *)
-           match branch_working r b with
-           | Some w => match assoc t (d_schema w) with
-                       | Some cols => ans_eqb a (ARows cols (rows_of t (d_data w)))
-                       | None => is_error a
-                       end
-           | None => is_error a
-           end
-         | _ => match a with ARows _ _ | AHist _ _ => want_commit r v t a | _ => true end   (* refusing is fine; rows must be the right ones *)
-         end
-N    if revdb_denotes r v then want_commit r v t a
-    else match (norm_base r (fst v), snd v) with
-         | (BBranch b, []) =>                         (* dirty branch: `db/branch` is the branch's working set *)
-           match branch_working r b with
-           | Some w => match assoc t (d_schema w) with
-                       | Some cols => ans_eqb a (ARows cols (rows_of t (d_data w)))
-                       | None => is_error a
-                       end
-           | None => is_error a
-           end
-         | _ => match a with ARows _ _ | AHist _ _ => want_commit r v t a | _ => true end   (* refusing is fine; rows must be the right ones *)
-         end
-_    if revdb_denotes r v then want_commit r v t a
-    else match (norm_base r (fst v), snd v) with
-         | (BBranch b, []) =>                         (* dirty branch: `db/branch` is the branch's working set *)
-           match branch_working r b with
-           | Some w => match assoc t (d_schema w) with
-                       | Some cols => ans_eqb a (ARows cols (rows_of t (d_data w)))
-                       | None => is_error a
-                       end
-           | None => is_error a
-           end
-         | _ => match a with ARows _ _ | AHist _ _ => want_commit r v t a | _ => true end   (* refusing is fine; rows must be the right ones *)
-         end
-s    if revdb_denotes r v then want_commit r v t a
-    else match (norm_base r (fst v), snd v) with
-         | (BBranch b, []) =>                         (* dirty branch: `db/branch` is the branch's working set *)
-           match branch_working r b with
-           | Some w => match assoc t (d_schema w) with
-                       | Some cols => ans_eqb a (ARows cols (rows_of t (d_data w)))
-                       | None => is_error a
-                       end
-           | None => is_error a
-           end
-         | _ => match a with ARows _ _ | AHist _ _ => want_commit r v t a | _ => true end   (* refusing is fine; rows must be the right ones *)
-         end
-c    if revdb_denotes r v then want_commit r v t a
-    else match (norm_base r (fst v), snd v) with
-         | (BBranch b, []) =>                         (* dirty branch: `db/branch` is the branch's working set *)
-           match branch_working r b with
-           | Some w => match assoc t (d_schema w) with
-                       | Some cols => ans_eqb a (ARows cols (rows_of t (d_data w)))
-                       | None => is_error a
-                       end
-           | None => is_error a
-           end
-         | _ => match a with ARows _ _ | AHist _ _ => want_commit r v t a | _ => true end   (* refusing is fine; rows must be the right ones *)
-         end
-o    if revdb_denotes r v then want_commit r v t a
-    else match (norm_base r (fst v), snd v) with
-         | (BBranch b, []) =>                         (* dirty branch: `db/branch` is the branch's working set *)
-           match branch_working r b with
-           | Some w => match assoc t (d_schema w) with
-                       | Some cols => ans_eqb a (ARows cols (rows_of t (d_data w)))
-                       | None => is_error a
-                       end
-           | None => is_error a
-           end
-         | _ => match a with ARows _ _ | AHist _ _ => want_commit r v t a | _ => true end   (* refusing is fine; rows must be the right ones *)
-         end
-p    if revdb_denotes r v then want_commit r v t a
-    else match (norm_base r (fst v), snd v) with
-         | (BBranch b, []) =>                         (* dirty branch: `db/branch` is the branch's working set *)
-           match branch_working r b with
-           | Some w => match assoc t (d_schema w) with
-                       | Some cols => ans_eqb a (ARows cols (rows_of t (d_data w)))
-                       | None => is_error a
-                       end
-           | None => is_error a
-           end
-         | _ => match a with ARows _ _ | AHist _ _ => want_commit r v t a | _ => true end   (* refusing is fine; rows must be the right ones *)
-         end
-e    if revdb_denotes r v then want_commit r v t a
-    else match (norm_base r (fst v), snd v) with
-         | (BBranch b, []) =>                         (* dirty branch: `db/branch` is the branch's working set *)
-           match branch_working r b with
-           | Some w => match assoc t (d_schema w) with
-                       | Some cols => ans_eqb a (ARows cols (rows_of t (d_data w)))
-                       | None => is_error a
-                       end
-           | None => is_error a
-           end
-         | _ => match a with ARows _ _ | AHist _ _ => want_commit r v t a | _ => true end   (* refusing is fine; rows must be the right ones *)
-         end
-.    if revdb_denotes r v then want_commit r v t a
-    else match (norm_base r (fst v), snd v) with
-         | (BBranch b, []) =>                         (* dirty branch: `db/branch` is the branch's working set *)
-           match branch_working r b with
-           | Some w => match assoc t (d_schema w) with
-                       | Some cols => ans_eqb a (ARows cols (rows_of t (d_data w)))
-                       | None => is_error a
-                       end
-           | None => is_error a
-           end
-         | _ => match a with ARows _ _ | AHist _ _ => want_commit r v t a | _ => true end   (* refusing is fine; rows must be the right ones *)
-         end
-
-    if revdb_denotes r v then want_commit r v t a
-    else match (norm_base r (fst v), snd v) with
-         | (BBranch b, []) =>                         (* dirty branch: `db/branch` is the branch's working set *)
-           match branch_working r b with
-           | Some w => match assoc t (d_schema w) with
-                       | Some cols => ans_eqb a (ARows cols (rows_of t (d_data w)))
-                       | None => is_error a
-                       end
-           | None => is_error a
-           end
-         | _ => match a with ARows _ _ | AHist _ _ => want_commit r v t a | _ => true end   (* refusing is fine; rows must be the right ones *)
-         end
-
-    if revdb_denotes r v then want_commit r v t a
-    else match (norm_base r (fst v), snd v) with
-         | (BBranch b, []) =>                         (* dirty branch: `db/branch` is the branch's working set *)
-           match branch_working r b with
-           | Some w => match assoc t (d_schema w) with
-                       | Some cols => ans_eqb a (ARows cols (rows_of t (d_data w)))
-                       | None => is_error a
-                       end
-           | None => is_error a
-           end
-         | _ => match a with ARows _ _ | AHist _ _ => want_commit r v t a | _ => true end   (* refusing is fine; rows must be the right ones *)
-         end
-I    if revdb_denotes r v then want_commit r v t a
-    else match (norm_base r (fst v), snd v) with
-         | (BBranch b, []) =>                         (* dirty branch: `db/branch` is the branch's working set *)
-           match branch_working r b with
-           | Some w => match assoc t (d_schema w) with
-                       | Some cols => ans_eqb a (ARows cols (rows_of t (d_data w)))
-                       | None => is_error a
-                       end
-           | None => is_error a
-           end
-         | _ => match a with ARows _ _ | AHist _ _ => want_commit r v t a | _ => true end   (* refusing is fine; rows must be the right ones *)
-         end
-n    if revdb_denotes r v then want_commit r v t a
-    else match (norm_base r (fst v), snd v) with
-         | (BBranch b, []) =>                         (* dirty branch: `db/branch` is the branch's working set *)
-           match branch_working r b with
-           | Some w => match assoc t (d_schema w) with
-                       | Some cols => ans_eqb a (ARows cols (rows_of t (d_data w)))
-                       | None => is_error a
-                       end
-           | None => is_error a
-           end
-         | _ => match a with ARows _ _ | AHist _ _ => want_commit r v t a | _ => true end   (* refusing is fine; rows must be the right ones *)
-         end
-d    if revdb_denotes r v then want_commit r v t a
-    else match (norm_base r (fst v), snd v) with
-         | (BBranch b, []) =>                         (* dirty branch: `db/branch` is the branch's working set *)
-           match branch_working r b with
-           | Some w => match assoc t (d_schema w) with
-                       | Some cols => ans_eqb a (ARows cols (rows_of t (d_data w)))
-                       | None => is_error a
-                       end
-           | None => is_error a
-           end
-         | _ => match a with ARows _ _ | AHist _ _ => want_commit r v t a | _ => true end   (* refusing is fine; rows must be the right ones *)
-         end
-u    if revdb_denotes r v then want_commit r v t a
-    else match (norm_base r (fst v), snd v) with
-         | (BBranch b, []) =>                         (* dirty branch: `db/branch` is the branch's working set *)
-           match branch_working r b with
-           | Some w => match assoc t (d_schema w) with
-                       | Some cols => ans_eqb a (ARows cols (rows_of t (d_data w)))
-                       | None => is_error a
-                       end
-           | None => is_error a
-           end
-         | _ => match a with ARows _ _ | AHist _ _ => want_commit r v t a | _ => true end   (* refusing is fine; rows must be the right ones *)
-         end
-c    if revdb_denotes r v then want_commit r v t a
-    else match (norm_base r (fst v), snd v) with
-         | (BBranch b, []) =>                         (* dirty branch: `db/branch` is the branch's working set *)
-           match branch_working r b with
-           | Some w => match assoc t (d_schema w) with
-                       | Some cols => ans_eqb a (ARows cols (rows_of t (d_data w)))
-                       | None => is_error a
-                       end
-           | None => is_error a
-           end
-         | _ => match a with ARows _ _ | AHist _ _ => want_commit r v t a | _ => true end   (* refusing is fine; rows must be the right ones *)
-         end
-t    if revdb_denotes r v then want_commit r v t a
-    else match (norm_base r (fst v), snd v) with
-         | (BBranch b, []) =>                         (* dirty branch: `db/branch` is the branch's working set *)
-           match branch_working r b with
-           | Some w => match assoc t (d_schema w) with
-                       | Some cols => ans_eqb a (ARows cols (rows_of t (d_data w)))
-                       | None => is_error a
-                       end
-           | None => is_error a
-           end
-         | _ => match a with ARows _ _ | AHist _ _ => want_commit r v t a | _ => true end   (* refusing is fine; rows must be the right ones *)
-         end
-i    if revdb_denotes r v then want_commit r v t a
-    else match (norm_base r (fst v), snd v) with
-         | (BBranch b, []) =>                         (* dirty branch: `db/branch` is the branch's working set *)
-           match branch_working r b with
-           | Some w => match assoc t (d_schema w) with
-                       | Some cols => ans_eqb a (ARows cols (rows_of t (d_data w)))
-                       | None => is_error a
-                       end
-           | None => is_error a
-           end
-         | _ => match a with ARows _ _ | AHist _ _ => want_commit r v t a | _ => true end   (* refusing is fine; rows must be the right ones *)
-         end
-v    if revdb_denotes r v then want_commit r v t a
-    else match (norm_base r (fst v), snd v) with
-         | (BBranch b, []) =>                         (* dirty branch: `db/branch` is the branch's working set *)
-           match branch_working r b with
-           | Some w => match assoc t (d_schema w) with
-                       | Some cols => ans_eqb a (ARows cols (rows_of t (d_data w)))
-                       | None => is_error a
-                       end
-           | None => is_error a
-           end
-         | _ => match a with ARows _ _ | AHist _ _ => want_commit r v t a | _ => true end   (* refusing is fine; rows must be the right ones *)
-         end
-e    if revdb_denotes r v then want_commit r v t a
-    else match (norm_base r (fst v), snd v) with
-         | (BBranch b, []) =>                         (* dirty branch: `db/branch` is the branch's working set *)
-           match branch_working r b with
-           | Some w => match assoc t (d_schema w) with
-                       | Some cols => ans_eqb a (ARows cols (rows_of t (d_data w)))
-                       | None => is_error a
-                       end
-           | None => is_error a
-           end
-         | _ => match a with ARows _ _ | AHist _ _ => want_commit r v t a | _ => true end   (* refusing is fine; rows must be the right ones *)
-         end
-     if revdb_denotes r v then want_commit r v t a
-    else match (norm_base r (fst v), snd v) with
-         | (BBranch b, []) =>                         (* dirty branch: `db/branch` is the branch's working set *)
-           match branch_working r b with
-           | Some w => match assoc t (d_schema w) with
-                       | Some cols => ans_eqb a (ARows cols (rows_of t (d_data w)))
-                       | None => is_error a
-                       end
-           | None => is_error a
-           end
-         | _ => match a with ARows _ _ | AHist _ _ => want_commit r v t a | _ => true end   (* refusing is fine; rows must be the right ones *)
-         end
-q    if revdb_denotes r v then want_commit r v t a
-    else match (norm_base r (fst v), snd v) with
-         | (BBranch b, []) =>                         (* dirty branch: `db/branch` is the branch's working set *)
-           match branch_working r b with
-           | Some w => match assoc t (d_schema w) with
-                       | Some cols => ans_eqb a (ARows cols (rows_of t (d_data w)))
-                       | None => is_error a
-                       end
-           | None => is_error a
-           end
-         | _ => match a with ARows _ _ | AHist _ _ => want_commit r v t a | _ => true end   (* refusing is fine; rows must be the right ones *)
-         end
-u    if revdb_denotes r v then want_commit r v t a
-    else match (norm_base r (fst v), snd v) with
-         | (BBranch b, []) =>                         (* dirty branch: `db/branch` is the branch's working set *)
-           match branch_working r b with
-           | Some w => match assoc t (d_schema w) with
-                       | Some cols => ans_eqb a (ARows cols (rows_of t (d_data w)))
-                       | None => is_error a
-                       end
-           | None => is_error a
-           end
-         | _ => match a with ARows _ _ | AHist _ _ => want_commit r v t a | _ => true end   (* refusing is fine; rows must be the right ones *)
-         end
-e    if revdb_denotes r v then want_commit r v t a
-    else match (norm_base r (fst v), snd v) with
-         | (BBranch b, []) =>                         (* dirty branch: `db/branch` is the branch's working set *)
-           match branch_working r b with
-           | Some w => match assoc t (d_schema w) with
-                       | Some cols => ans_eqb a (ARows cols (rows_of t (d_data w)))
-                       | None => is_error a
-                       end
-           | None => is_error a
-           end
-         | _ => match a with ARows _ _ | AHist _ _ => want_commit r v t a | _ => true end   (* refusing is fine; rows must be the right ones *)
-         end
-r    if revdb_denotes r v then want_commit r v t a
-    else match (norm_base r (fst v), snd v) with
-         | (BBranch b, []) =>                         (* dirty branch: `db/branch` is the branch's working set *)
-           match branch_working r b with
-           | Some w => match assoc t (d_schema w) with
-                       | Some cols => ans_eqb a (ARows cols (rows_of t (d_data w)))
-                       | None => is_error a
-                       end
-           | None => is_error a
-           end
-         | _ => match a with ARows _ _ | AHist _ _ => want_commit r v t a | _ => true end   (* refusing is fine; rows must be the right ones *)
-         end
-y    if revdb_denotes r v then want_commit r v t a
-    else match (norm_base r (fst v), snd v) with
-         | (BBranch b, []) =>                         (* dirty branch: `db/branch` is the branch's working set *)
-           match branch_working r b with
-           | Some w => match assoc t (d_schema w) with
-                       | Some cols => ans_eqb a (ARows cols (rows_of t (d_data w)))
-                       | None => is_error a
-                       end
-           | None => is_error a
-           end
-         | _ => match a with ARows _ _ | AHist _ _ => want_commit r v t a | _ => true end   (* refusing is fine; rows must be the right ones *)
-         end
-     if revdb_denotes r v then want_commit r v t a
-    else match (norm_base r (fst v), snd v) with
-         | (BBranch b, []) =>                         (* dirty branch: `db/branch` is the branch's working set *)
-           match branch_working r b with
-           | Some w => match assoc t (d_schema w) with
-                       | Some cols => ans_eqb a (ARows cols (rows_of t (d_data w)))
-                       | None => is_error a
-                       end
-           | None => is_error a
-           end
-         | _ => match a with ARows _ _ | AHist _ _ => want_commit r v t a | _ => true end   (* refusing is fine; rows must be the right ones *)
-         end
-:    if revdb_denotes r v then want_commit r v t a
-    else match (norm_base r (fst v), snd v) with
-         | (BBranch b, []) =>                         (* dirty branch: `db/branch` is the branch's working set *)
-           match branch_working r b with
-           | Some w => match assoc t (d_schema w) with
-                       | Some cols => ans_eqb a (ARows cols (rows_of t (d_data w)))
-                       | None => is_error a
-                       end
-           | None => is_error a
-           end
-         | _ => match a with ARows _ _ | AHist _ _ => want_commit r v t a | _ => true end   (* refusing is fine; rows must be the right ones *)
-         end
-=    if revdb_denotes r v then want_commit r v t a
-    else match (norm_base r (fst v), snd v) with
-         | (BBranch b, []) =>                         (* dirty branch: `db/branch` is the branch's working set *)
-           match branch_working r b with
-           | Some w => match assoc t (d_schema w) with
-                       | Some cols => ans_eqb a (ARows cols (rows_of t (d_data w)))
-                       | None => is_error a
-                       end
-           | None => is_error a
-           end
-         | _ => match a with ARows _ _ | AHist _ _ => want_commit r v t a | _ => true end   (* refusing is fine; rows must be the right ones *)
-         end
-
-    if revdb_denotes r v then want_commit r v t a
-    else match (norm_base r (fst v), snd v) with
-         | (BBranch b, []) =>                         (* dirty branch: `db/branch` is the branch's working set *)
-           match branch_working r b with
-           | Some w => match assoc t (d_schema w) with
-                       | Some cols => ans_eqb a (ARows cols (rows_of t (d_data w)))
-                       | None => is_error a
-                       end
-           | None => is_error a
-           end
-         | _ => match a with ARows _ _ | AHist _ _ => want_commit r v t a | _ => true end   (* refusing is fine; rows must be the right ones *)
-         end
-|    if revdb_denotes r v then want_commit r v t a
-    else match (norm_base r (fst v), snd v) with
-         | (BBranch b, []) =>                         (* dirty branch: `db/branch` is the branch's working set *)
-           match branch_working r b with
-           | Some w => match assoc t (d_schema w) with
-                       | Some cols => ans_eqb a (ARows cols (rows_of t (d_data w)))
-                       | None => is_error a
-                       end
-           | None => is_error a
-           end
-         | _ => match a with ARows _ _ | AHist _ _ => want_commit r v t a | _ => true end   (* refusing is fine; rows must be the right ones *)
-         end
-     if revdb_denotes r v then want_commit r v t a
-    else match (norm_base r (fst v), snd v) with
-         | (BBranch b, []) =>                         (* dirty branch: `db/branch` is the branch's working set *)
-           match branch_working r b with
-           | Some w => match assoc t (d_schema w) with
-                       | Some cols => ans_eqb a (ARows cols (rows_of t (d_data w)))
-                       | None => is_error a
-                       end
-           | None => is_error a
-           end
-         | _ => match a with ARows _ _ | AHist _ _ => want_commit r v t a | _ => true end   (* refusing is fine; rows must be the right ones *)
-         end
-Q    if revdb_denotes r v then want_commit r v t a
-    else match (norm_base r (fst v), snd v) with
-         | (BBranch b, []) =>                         (* dirty branch: `db/branch` is the branch's working set *)
-           match branch_working r b with
-           | Some w => match assoc t (d_schema w) with
-                       | Some cols => ans_eqb a (ARows cols (rows_of t (d_data w)))
-                       | None => is_error a
-                       end
-           | None => is_error a
-           end
-         | _ => match a with ARows _ _ | AHist _ _ => want_commit r v t a | _ => true end   (* refusing is fine; rows must be the right ones *)
-         end
-A    if revdb_denotes r v then want_commit r v t a
-    else match (norm_base r (fst v), snd v) with
-         | (BBranch b, []) =>                         (* dirty branch: `db/branch` is the branch's working set *)
-           match branch_working r b with
-           | Some w => match assoc t (d_schema w) with
-                       | Some cols => ans_eqb a (ARows cols (rows_of t (d_data w)))
-                       | None => is_error a
-                       end
-           | None => is_error a
-           end
-         | _ => match a with ARows _ _ | AHist _ _ => want_commit r v t a | _ => true end   (* refusing is fine; rows must be the right ones *)
-         end
-s    if revdb_denotes r v then want_commit r v t a
-    else match (norm_base r (fst v), snd v) with
-         | (BBranch b, []) =>                         (* dirty branch: `db/branch` is the branch's working set *)
-           match branch_working r b with
-           | Some w => match assoc t (d_schema w) with
-                       | Some cols => ans_eqb a (ARows cols (rows_of t (d_data w)))
-                       | None => is_error a
-                       end
-           | None => is_error a
-           end
-         | _ => match a with ARows _ _ | AHist _ _ => want_commit r v t a | _ => true end   (* refusing is fine; rows must be the right ones *)
-         end
-O    if revdb_denotes r v then want_commit r v t a
-    else match (norm_base r (fst v), snd v) with
-         | (BBranch b, []) =>                         (* dirty branch: `db/branch` is the branch's working set *)
-           match branch_working r b with
-           | Some w => match assoc t (d_schema w) with
-                       | Some cols => ans_eqb a (ARows cols (rows_of t (d_data w)))
-                       | None => is_error a
-                       end
-           | None => is_error a
-           end
-         | _ => match a with ARows _ _ | AHist _ _ => want_commit r v t a | _ => true end   (* refusing is fine; rows must be the right ones *)
-         end
-f    if revdb_denotes r v then want_commit r v t a
-    else match (norm_base r (fst v), snd v) with
-         | (BBranch b, []) =>                         (* dirty branch: `db/branch` is the branch's working set *)
-           match branch_working r b with
-           | Some w => match assoc t (d_schema w) with
-                       | Some cols => ans_eqb a (ARows cols (rows_of t (d_data w)))
-                       | None => is_error a
-                       end
-           | None => is_error a
-           end
-         | _ => match a with ARows _ _ | AHist _ _ => want_commit r v t a | _ => true end   (* refusing is fine; rows must be the right ones *)
-         end
-     if revdb_denotes r v then want_commit r v t a
-    else match (norm_base r (fst v), snd v) with
-         | (BBranch b, []) =>                         (* dirty branch: `db/branch` is the branch's working set *)
-           match branch_working r b with
-           | Some w => match assoc t (d_schema w) with
-                       | Some cols => ans_eqb a (ARows cols (rows_of t (d_data w)))
-                       | None => is_error a
-                       end
-           | None => is_error a
-           end
-         | _ => match a with ARows _ _ | AHist _ _ => want_commit r v t a | _ => true end   (* refusing is fine; rows must be the right ones *)
-         end
-(    if revdb_denotes r v then want_commit r v t a
-    else match (norm_base r (fst v), snd v) with
-         | (BBranch b, []) =>                         (* dirty branch: `db/branch` is the branch's working set *)
-           match branch_working r b with
-           | Some w => match assoc t (d_schema w) with
-                       | Some cols => ans_eqb a (ARows cols (rows_of t (d_data w)))
-                       | None => is_error a
-                       end
-           | None => is_error a
-           end
-         | _ => match a with ARows _ _ | AHist _ _ => want_commit r v t a | _ => true end   (* refusing is fine; rows must be the right ones *)
-         end
-v    if revdb_denotes r v then want_commit r v t a
-    else match (norm_base r (fst v), snd v) with
-         | (BBranch b, []) =>                         (* dirty branch: `db/branch` is the branch's working set *)
-           match branch_working r b with
-           | Some w => match assoc t (d_schema w) with
-                       | Some cols => ans_eqb a (ARows cols (rows_of t (d_data w)))
-                       | None => is_error a
-                       end
-           | None => is_error a
-           end
-         | _ => match a with ARows _ _ | AHist _ _ => want_commit r v t a | _ => true end   (* refusing is fine; rows must be the right ones *)
-         end
-     if revdb_denotes r v then want_commit r v t a
-    else match (norm_base r (fst v), snd v) with
-         | (BBranch b, []) =>                         (* dirty branch: `db/branch` is the branch's working set *)
-           match branch_working r b with
-           | Some w => match assoc t (d_schema w) with
-                       | Some cols => ans_eqb a (ARows cols (rows_of t (d_data w)))
-                       | None => is_error a
-                       end
-           | None => is_error a
-           end
-         | _ => match a with ARows _ _ | AHist _ _ => want_commit r v t a | _ => true end   (* refusing is fine; rows must be the right ones *)
-         end
-:    if revdb_denotes r v then want_commit r v t a
-    else match (norm_base r (fst v), snd v) with
-         | (BBranch b, []) =>                         (* dirty branch: `db/branch` is the branch's working set *)
-           match branch_working r b with
-           | Some w => match assoc t (d_schema w) with
-                       | Some cols => ans_eqb a (ARows cols (rows_of t (d_data w)))
-                       | None => is_error a
-                       end
-           | None => is_error a
-           end
-         | _ => match a with ARows _ _ | AHist _ _ => want_commit r v t a | _ => true end   (* refusing is fine; rows must be the right ones *)
-         end
-     if revdb_denotes r v then want_commit r v t a
-    else match (norm_base r (fst v), snd v) with
-         | (BBranch b, []) =>                         (* dirty branch: `db/branch` is the branch's working set *)
-           match branch_working r b with
-           | Some w => match assoc t (d_schema w) with
-                       | Some cols => ans_eqb a (ARows cols (rows_of t (d_data w)))
-                       | None => is_error a
-                       end
-           | None => is_error a
-           end
-         | _ => match a with ARows _ _ | AHist _ _ => want_commit r v t a | _ => true end   (* refusing is fine; rows must be the right ones *)
-         end
-r    if revdb_denotes r v then want_commit r v t a
-    else match (norm_base r (fst v), snd v) with
-         | (BBranch b, []) =>                         (* dirty branch: `db/branch` is the branch's working set *)
-           match branch_working r b with
-           | Some w => match assoc t (d_schema w) with
-                       | Some cols => ans_eqb a (ARows cols (rows_of t (d_data w)))
-                       | None => is_error a
-                       end
-           | None => is_error a
-           end
-         | _ => match a with ARows _ _ | AHist _ _ => want_commit r v t a | _ => true end   (* refusing is fine; rows must be the right ones *)
-         end
-e    if revdb_denotes r v then want_commit r v t a
-    else match (norm_base r (fst v), snd v) with
-         | (BBranch b, []) =>                         (* dirty branch: `db/branch` is the branch's working set *)
-           match branch_working r b with
-           | Some w => match assoc t (d_schema w) with
-                       | Some cols => ans_eqb a (ARows cols (rows_of t (d_data w)))
-                       | None => is_error a
-                       end
-           | None => is_error a
-           end
-         | _ => match a with ARows _ _ | AHist _ _ => want_commit r v t a | _ => true end   (* refusing is fine; rows must be the right ones *)
-         end
-v    if revdb_denotes r v then want_commit r v t a
-    else match (norm_base r (fst v), snd v) with
-         | (BBranch b, []) =>                         (* dirty branch: `db/branch` is the branch's working set *)
-           match branch_working r b with
-           | Some w => match assoc t (d_schema w) with
-                       | Some cols => ans_eqb a (ARows cols (rows_of t (d_data w)))
-                       | None => is_error a
-                       end
-           | None => is_error a
-           end
-         | _ => match a with ARows _ _ | AHist _ _ => want_commit r v t a | _ => true end   (* refusing is fine; rows must be the right ones *)
-         end
-)    if revdb_denotes r v then want_commit r v t a
-    else match (norm_base r (fst v), snd v) with
-         | (BBranch b, []) =>                         (* dirty branch: `db/branch` is the branch's working set *)
-           match branch_working r b with
-           | Some w => match assoc t (d_schema w) with
-                       | Some cols => ans_eqb a (ARows cols (rows_of t (d_data w)))
-                       | None => is_error a
-                       end
-           | None => is_error a
-           end
-         | _ => match a with ARows _ _ | AHist _ _ => want_commit r v t a | _ => true end   (* refusing is fine; rows must be the right ones *)
-         end
-     if revdb_denotes r v then want_commit r v t a
-    else match (norm_base r (fst v), snd v) with
-         | (BBranch b, []) =>                         (* dirty branch: `db/branch` is the branch's working set *)
-           match branch_working r b with
-           | Some w => match assoc t (d_schema w) with
-                       | Some cols => ans_eqb a (ARows cols (rows_of t (d_data w)))
-                       | None => is_error a
-                       end
-           | None => is_error a
-           end
-         | _ => match a with ARows _ _ | AHist _ _ => want_commit r v t a | _ => true end   (* refusing is fine; rows must be the right ones *)
-         end
-(    if revdb_denotes r v then want_commit r v t a
-    else match (norm_base r (fst v), snd v) with
-         | (BBranch b, []) =>                         (* dirty branch: `db/branch` is the branch's working set *)
-           match branch_working r b with
-           | Some w => match assoc t (d_schema w) with
-                       | Some cols => ans_eqb a (ARows cols (rows_of t (d_data w)))
-                       | None => is_error a
-                       end
-           | None => is_error a
-           end
-         | _ => match a with ARows _ _ | AHist _ _ => want_commit r v t a | _ => true end   (* refusing is fine; rows must be the right ones *)
-         end
-t    if revdb_denotes r v then want_commit r v t a
-    else match (norm_base r (fst v), snd v) with
-         | (BBranch b, []) =>                         (* dirty branch: `db/branch` is the branch's working set *)
-           match branch_working r b with
-           | Some w => match assoc t (d_schema w) with
-                       | Some cols => ans_eqb a (ARows cols (rows_of t (d_data w)))
-                       | None => is_error a
-                       end
-           | None => is_error a
-           end
-         | _ => match a with ARows _ _ | AHist _ _ => want_commit r v t a | _ => true end   (* refusing is fine; rows must be the right ones *)
-         end
-     if revdb_denotes r v then want_commit r v t a
-    else match (norm_base r (fst v), snd v) with
-         | (BBranch b, []) =>                         (* dirty branch: `db/branch` is the branch's working set *)
-           match branch_working r b with
-           | Some w => match assoc t (d_schema w) with
-                       | Some cols => ans_eqb a (ARows cols (rows_of t (d_data w)))
-                       | None => is_error a
-                       end
-           | None => is_error a
-           end
-         | _ => match a with ARows _ _ | AHist _ _ => want_commit r v t a | _ => true end   (* refusing is fine; rows must be the right ones *)
-         end
-:    if revdb_denotes r v then want_commit r v t a
-    else match (norm_base r (fst v), snd v) with
-         | (BBranch b, []) =>                         (* dirty branch: `db/branch` is the branch's working set *)
-           match branch_working r b with
-           | Some w => match assoc t (d_schema w) with
-                       | Some cols => ans_eqb a (ARows cols (rows_of t (d_data w)))
-                       | None => is_error a
-                       end
-           | None => is_error a
-           end
-         | _ => match a with ARows _ _ | AHist _ _ => want_commit r v t a | _ => true end   (* refusing is fine; rows must be the right ones *)
-         end
-     if revdb_denotes r v then want_commit r v t a
-    else match (norm_base r (fst v), snd v) with
-         | (BBranch b, []) =>                         (* dirty branch: `db/branch` is the branch's working set *)
-           match branch_working r b with
-           | Some w => match assoc t (d_schema w) with
-                       | Some cols => ans_eqb a (ARows cols (rows_of t (d_data w)))
-                       | None => is_error a
-                       end
-           | None => is_error a
-           end
-         | _ => match a with ARows _ _ | AHist _ _ => want_commit r v t a | _ => true end   (* refusing is fine; rows must be the right ones *)
-         end
-N    if revdb_denotes r v then want_commit r v t a
-    else match (norm_base r (fst v), snd v) with
-         | (BBranch b, []) =>                         (* dirty branch: `db/branch` is the branch's working set *)
-           match branch_working r b with
-           | Some w => match assoc t (d_schema w) with
-                       | Some cols => ans_eqb a (ARows cols (rows_of t (d_data w)))
-                       | None => is_error a
-                       end
-           | None => is_error a
-           end
-         | _ => match a with ARows _ _ | AHist _ _ => want_commit r v t a | _ => true end   (* refusing is fine; rows must be the right ones *)
-         end
-)    if revdb_denotes r v then want_commit r v t a
-    else match (norm_base r (fst v), snd v) with
-         | (BBranch b, []) =>                         (* dirty branch: `db/branch` is the branch's working set *)
-           match branch_working r b with
-           | Some w => match assoc t (d_schema w) with
-                       | Some cols => ans_eqb a (ARows cols (rows_of t (d_data w)))
-                       | None => is_error a
-                       end
-           | None => is_error a
-           end
-         | _ => match a with ARows _ _ | AHist _ _ => want_commit r v t a | _ => true end   (* refusing is fine; rows must be the right ones *)
-         end
-     if revdb_denotes r v then want_commit r v t a
-    else match (norm_base r (fst v), snd v) with
-         | (BBranch b, []) =>                         (* dirty branch: `db/branch` is the branch's working set *)
-           match branch_working r b with
-           | Some w => match assoc t (d_schema w) with
-                       | Some cols => ans_eqb a (ARows cols (rows_of t (d_data w)))
-                       | None => is_error a
-                       end
-           | None => is_error a
-           end
-         | _ => match a with ARows _ _ | AHist _ _ => want_commit r v t a | _ => true end   (* refusing is fine; rows must be the right ones *)
-         end
-     if revdb_denotes r v then want_commit r v t a
-    else match (norm_base r (fst v), snd v) with
-         | (BBranch b, []) =>                         (* dirty branch: `db/branch` is the branch's working set *)
-           match branch_working r b with
-           | Some w => match assoc t (d_schema w) with
-                       | Some cols => ans_eqb a (ARows cols (rows_of t (d_data w)))
-                       | None => is_error a
-                       end
-           | None => is_error a
-           end
-         | _ => match a with ARows _ _ | AHist _ _ => want_commit r v t a | _ => true end   (* refusing is fine; rows must be the right ones *)
-         end
-     if revdb_denotes r v then want_commit r v t a
-    else match (norm_base r (fst v), snd v) with
-         | (BBranch b, []) =>                         (* dirty branch: `db/branch` is the branch's working set *)
-           match branch_working r b with
-           | Some w => match assoc t (d_schema w) with
-                       | Some cols => ans_eqb a (ARows cols (rows_of t (d_data w)))
-                       | None => is_error a
-                       end
-           | None => is_error a
-           end
-         | _ => match a with ARows _ _ | AHist _ _ => want_commit r v t a | _ => true end   (* refusing is fine; rows must be the right ones *)
-         end
-     if revdb_denotes r v then want_commit r v t a
-    else match (norm_base r (fst v), snd v) with
-         | (BBranch b, []) =>                         (* dirty branch: `db/branch` is the branch's working set *)
-           match branch_working r b with
-           | Some w => match assoc t (d_schema w) with
-                       | Some cols => ans_eqb a (ARows cols (rows_of t (d_data w)))
-                       | None => is_error a
-                       end
-           | None => is_error a
-           end
-         | _ => match a with ARows _ _ | AHist _ _ => want_commit r v t a | _ => true end   (* refusing is fine; rows must be the right ones *)
-         end
-     if revdb_denotes r v then want_commit r v t a
-    else match (norm_base r (fst v), snd v) with
-         | (BBranch b, []) =>                         (* dirty branch: `db/branch` is the branch's working set *)
-           match branch_working r b with
-           | Some w => match assoc t (d_schema w) with
-                       | Some cols => ans_eqb a (ARows cols (rows_of t (d_data w)))
-                       | None => is_error a
-                       end
-           | None => is_error a
-           end
-         | _ => match a with ARows _ _ | AHist _ _ => want_commit r v t a | _ => true end   (* refusing is fine; rows must be the right ones *)
-         end
-     if revdb_denotes r v then want_commit r v t a
-    else match (norm_base r (fst v), snd v) with
-         | (BBranch b, []) =>                         (* dirty branch: `db/branch` is the branch's working set *)
-           match branch_working r b with
-           | Some w => match assoc t (d_schema w) with
-                       | Some cols => ans_eqb a (ARows cols (rows_of t (d_data w)))
-                       | None => is_error a
-                       end
-           | None => is_error a
-           end
-         | _ => match a with ARows _ _ | AHist _ _ => want_commit r v t a | _ => true end   (* refusing is fine; rows must be the right ones *)
-         end
-     if revdb_denotes r v then want_commit r v t a
-    else match (norm_base r (fst v), snd v) with
-         | (BBranch b, []) =>                         (* dirty branch: `db/branch` is the branch's working set *)
-           match branch_working r b with
-           | Some w => match assoc t (d_schema w) with
-                       | Some cols => ans_eqb a (ARows cols (rows_of t (d_data w)))
-                       | None => is_error a
-                       end
-           | None => is_error a
-           end
-         | _ => match a with ARows _ _ | AHist _ _ => want_commit r v t a | _ => true end   (* refusing is fine; rows must be the right ones *)
-         end
-     if revdb_denotes r v then want_commit r v t a
-    else match (norm_base r (fst v), snd v) with
-         | (BBranch b, []) =>                         (* dirty branch: `db/branch` is the branch's working set *)
-           match branch_working r b with
-           | Some w => match assoc t (d_schema w) with
-                       | Some cols => ans_eqb a (ARows cols (rows_of t (d_data w)))
-                       | None => is_error a
-                       end
-           | None => is_error a
-           end
-         | _ => match a with ARows _ _ | AHist _ _ => want_commit r v t a | _ => true end   (* refusing is fine; rows must be the right ones *)
-         end
-(    if revdb_denotes r v then want_commit r v t a
-    else match (norm_base r (fst v), snd v) with
-         | (BBranch b, []) =>                         (* dirty branch: `db/branch` is the branch's working set *)
-           match branch_working r b with
-           | Some w => match assoc t (d_schema w) with
-                       | Some cols => ans_eqb a (ARows cols (rows_of t (d_data w)))
-                       | None => is_error a
-                       end
-           | None => is_error a
-           end
-         | _ => match a with ARows _ _ | AHist _ _ => want_commit r v t a | _ => true end   (* refusing is fine; rows must be the right ones *)
-         end
-*    if revdb_denotes r v then want_commit r v t a
-    else match (norm_base r (fst v), snd v) with
-         | (BBranch b, []) =>                         (* dirty branch: `db/branch` is the branch's working set *)
-           match branch_working r b with
-           | Some w => match assoc t (d_schema w) with
-                       | Some cols => ans_eqb a (ARows cols (rows_of t (d_data w)))
-                       | None => is_error a
-                       end
-           | None => is_error a
-           end
-         | _ => match a with ARows _ _ | AHist _ _ => want_commit r v t a | _ => true end   (* refusing is fine; rows must be the right ones *)
-         end
-     if revdb_denotes r v then want_commit r v t a
-    else match (norm_base r (fst v), snd v) with
-         | (BBranch b, []) =>                         (* dirty branch: `db/branch` is the branch's working set *)
-           match branch_working r b with
-           | Some w => match assoc t (d_schema w) with
-                       | Some cols => ans_eqb a (ARows cols (rows_of t (d_data w)))
-                       | None => is_error a
-                       end
-           | None => is_error a
-           end
-         | _ => match a with ARows _ _ | AHist _ _ => want_commit r v t a | _ => true end   (* refusing is fine; rows must be the right ones *)
-         end
-S    if revdb_denotes r v then want_commit r v t a
-    else match (norm_base r (fst v), snd v) with
-         | (BBranch b, []) =>                         (* dirty branch: `db/branch` is the branch's working set *)
-           match branch_working r b with
-           | Some w => match assoc t (d_schema w) with
-                       | Some cols => ans_eqb a (ARows cols (rows_of t (d_data w)))
-                       | None => is_error a
-                       end
-           | None => is_error a
-           end
-         | _ => match a with ARows _ _ | AHist _ _ => want_commit r v t a | _ => true end   (* refusing is fine; rows must be the right ones *)
-         end
-E    if revdb_denotes r v then want_commit r v t a
-    else match (norm_base r (fst v), snd v) with
-         | (BBranch b, []) =>                         (* dirty branch: `db/branch` is the branch's working set *)
-           match branch_working r b with
-           | Some w => match assoc t (d_schema w) with
-                       | Some cols => ans_eqb a (ARows cols (rows_of t (d_data w)))
-                       | None => is_error a
-                       end
-           | None => is_error a
-           end
-         | _ => match a with ARows _ _ | AHist _ _ => want_commit r v t a | _ => true end   (* refusing is fine; rows must be the right ones *)
-         end
-L    if revdb_denotes r v then want_commit r v t a
-    else match (norm_base r (fst v), snd v) with
-         | (BBranch b, []) =>                         (* dirty branch: `db/branch` is the branch's working set *)
-           match branch_working r b with
-           | Some w => match assoc t (d_schema w) with
-                       | Some cols => ans_eqb a (ARows cols (rows_of t (d_data w)))
-                       | None => is_error a
-                       end
-           | None => is_error a
-           end
-         | _ => match a with ARows _ _ | AHist _ _ => want_commit r v t a | _ => true end   (* refusing is fine; rows must be the right ones *)
-         end
-E    if revdb_denotes r v then want_commit r v t a
-    else match (norm_base r (fst v), snd v) with
-         | (BBranch b, []) =>                         (* dirty branch: `db/branch` is the branch's working set *)
-           match branch_working r b with
-           | Some w => match assoc t (d_schema w) with
-                       | Some cols => ans_eqb a (ARows cols (rows_of t (d_data w)))
-                       | None => is_error a
-                       end
-           | None => is_error a
-           end
-         | _ => match a with ARows _ _ | AHist _ _ => want_commit r v t a | _ => true end   (* refusing is fine; rows must be the right ones *)
-         end
-C    if revdb_denotes r v then want_commit r v t a
-    else match (norm_base r (fst v), snd v) with
-         | (BBranch b, []) =>                         (* dirty branch: `db/branch` is the branch's working set *)
-           match branch_working r b with
-           | Some w => match assoc t (d_schema w) with
-                       | Some cols => ans_eqb a (ARows cols (rows_of t (d_data w)))
-                       | None => is_error a
-                       end
-           | None => is_error a
-           end
-         | _ => match a with ARows _ _ | AHist _ _ => want_commit r v t a | _ => true end   (* refusing is fine; rows must be the right ones *)
-         end
-T    if revdb_denotes r v then want_commit r v t a
-    else match (norm_base r (fst v), snd v) with
-         | (BBranch b, []) =>                         (* dirty branch: `db/branch` is the branch's working set *)
-           match branch_working r b with
-           | Some w => match assoc t (d_schema w) with
-                       | Some cols => ans_eqb a (ARows cols (rows_of t (d_data w)))
-                       | None => is_error a
-                       end
-           | None => is_error a
-           end
-         | _ => match a with ARows _ _ | AHist _ _ => want_commit r v t a | _ => true end   (* refusing is fine; rows must be the right ones *)
-         end
-     if revdb_denotes r v then want_commit r v t a
-    else match (norm_base r (fst v), snd v) with
-         | (BBranch b, []) =>                         (* dirty branch: `db/branch` is the branch's working set *)
-           match branch_working r b with
-           | Some w => match assoc t (d_schema w) with
-                       | Some cols => ans_eqb a (ARows cols (rows_of t (d_data w)))
-                       | None => is_error a
-                       end
-           | None => is_error a
-           end
-         | _ => match a with ARows _ _ | AHist _ _ => want_commit r v t a | _ => true end   (* refusing is fine; rows must be the right ones *)
-         end
-*    if revdb_denotes r v then want_commit r v t a
-    else match (norm_base r (fst v), snd v) with
-         | (BBranch b, []) =>                         (* dirty branch: `db/branch` is the branch's working set *)
-           match branch_working r b with
-           | Some w => match assoc t (d_schema w) with
-                       | Some cols => ans_eqb a (ARows cols (rows_of t (d_data w)))
-                       | None => is_error a
-                       end
-           | None => is_error a
-           end
-         | _ => match a with ARows _ _ | AHist _ _ => want_commit r v t a | _ => true end   (* refusing is fine; rows must be the right ones *)
-         end
-     if revdb_denotes r v then want_commit r v t a
-    else match (norm_base r (fst v), snd v) with
-         | (BBranch b, []) =>                         (* dirty branch: `db/branch` is the branch's working set *)
-           match branch_working r b with
-           | Some w => match assoc t (d_schema w) with
-                       | Some cols => ans_eqb a (ARows cols (rows_of t (d_data w)))
-                       | None => is_error a
-                       end
-           | None => is_error a
-           end
-         | _ => match a with ARows _ _ | AHist _ _ => want_commit r v t a | _ => true end   (* refusing is fine; rows must be the right ones *)
-         end
-F    if revdb_denotes r v then want_commit r v t a
-    else match (norm_base r (fst v), snd v) with
-         | (BBranch b, []) =>                         (* dirty branch: `db/branch` is the branch's working set *)
-           match branch_working r b with
-           | Some w => match assoc t (d_schema w) with
-                       | Some cols => ans_eqb a (ARows cols (rows_of t (d_data w)))
-                       | None => is_error a
-                       end
-           | None => is_error a
-           end
-         | _ => match a with ARows _ _ | AHist _ _ => want_commit r v t a | _ => true end   (* refusing is fine; rows must be the right ones *)
-         end
-R    if revdb_denotes r v then want_commit r v t a
-    else match (norm_base r (fst v), snd v) with
-         | (BBranch b, []) =>                         (* dirty branch: `db/branch` is the branch's working set *)
-           match branch_working r b with
-           | Some w => match assoc t (d_schema w) with
-                       | Some cols => ans_eqb a (ARows cols (rows_of t (d_data w)))
-                       | None => is_error a
-                       end
-           | None => is_error a
-           end
-         | _ => match a with ARows _ _ | AHist _ _ => want_commit r v t a | _ => true end   (* refusing is fine; rows must be the right ones *)
-         end
-O    if revdb_denotes r v then want_commit r v t a
-    else match (norm_base r (fst v), snd v) with
-         | (BBranch b, []) =>                         (* dirty branch: `db/branch` is the branch's working set *)
-           match branch_working r b with
-           | Some w => match assoc t (d_schema w) with
-                       | Some cols => ans_eqb a (ARows cols (rows_of t (d_data w)))
-                       | None => is_error a
-                       end
-           | None => is_error a
-           end
-         | _ => match a with ARows _ _ | AHist _ _ => want_commit r v t a | _ => true end   (* refusing is fine; rows must be the right ones *)
-         end
-M    if revdb_denotes r v then want_commit r v t a
-    else match (norm_base r (fst v), snd v) with
-         | (BBranch b, []) =>                         (* dirty branch: `db/branch` is the branch's working set *)
-           match branch_working r b with
-           | Some w => match assoc t (d_schema w) with
-                       | Some cols => ans_eqb a (ARows cols (rows_of t (d_data w)))
-                       | None => is_error a
-                       end
-           | None => is_error a
-           end
-         | _ => match a with ARows _ _ | AHist _ _ => want_commit r v t a | _ => true end   (* refusing is fine; rows must be the right ones *)
-         end
-     if revdb_denotes r v then want_commit r v t a
-    else match (norm_base r (fst v), snd v) with
-         | (BBranch b, []) =>                         (* dirty branch: `db/branch` is the branch's working set *)
-           match branch_working r b with
-           | Some w => match assoc t (d_schema w) with
-                       | Some cols => ans_eqb a (ARows cols (rows_of t (d_data w)))
-                       | None => is_error a
-                       end
-           | None => is_error a
-           end
-         | _ => match a with ARows _ _ | AHist _ _ => want_commit r v t a | _ => true end   (* refusing is fine; rows must be the right ones *)
-         end
-t    if revdb_denotes r v then want_commit r v t a
-    else match (norm_base r (fst v), snd v) with
-         | (BBranch b, []) =>                         (* dirty branch: `db/branch` is the branch's working set *)
-           match branch_working r b with
-           | Some w => match assoc t (d_schema w) with
-                       | Some cols => ans_eqb a (ARows cols (rows_of t (d_data w)))
-                       | None => is_error a
-                       end
-           | None => is_error a
-           end
-         | _ => match a with ARows _ _ | AHist _ _ => want_commit r v t a | _ => true end   (* refusing is fine; rows must be the right ones *)
-         end
-     if revdb_denotes r v then want_commit r v t a
-    else match (norm_base r (fst v), snd v) with
-         | (BBranch b, []) =>                         (* dirty branch: `db/branch` is the branch's working set *)
-           match branch_working r b with
-           | Some w => match assoc t (d_schema w) with
-                       | Some cols => ans_eqb a (ARows cols (rows_of t (d_data w)))
-                       | None => is_error a
-                       end
-           | None => is_error a
-           end
-         | _ => match a with ARows _ _ | AHist _ _ => want_commit r v t a | _ => true end   (* refusing is fine; rows must be the right ones *)
-         end
-A    if revdb_denotes r v then want_commit r v t a
-    else match (norm_base r (fst v), snd v) with
-         | (BBranch b, []) =>                         (* dirty branch: `db/branch` is the branch's working set *)
-           match branch_working r b with
-           | Some w => match assoc t (d_schema w) with
-                       | Some cols => ans_eqb a (ARows cols (rows_of t (d_data w)))
-                       | None => is_error a
-                       end
-           | None => is_error a
-           end
-         | _ => match a with ARows _ _ | AHist _ _ => want_commit r v t a | _ => true end   (* refusing is fine; rows must be the right ones *)
-         end
-S    if revdb_denotes r v then want_commit r v t a
-    else match (norm_base r (fst v), snd v) with
-         | (BBranch b, []) =>                         (* dirty branch: `db/branch` is the branch's working set *)
-           match branch_working r b with
-           | Some w => match assoc t (d_schema w) with
-                       | Some cols => ans_eqb a (ARows cols (rows_of t (d_data w)))
-                       | None => is_error a
-                       end
-           | None => is_error a
-           end
-         | _ => match a with ARows _ _ | AHist _ _ => want_commit r v t a | _ => true end   (* refusing is fine; rows must be the right ones *)
-         end
-     if revdb_denotes r v then want_commit r v t a
-    else match (norm_base r (fst v), snd v) with
-         | (BBranch b, []) =>                         (* dirty branch: `db/branch` is the branch's working set *)
-           match branch_working r b with
-           | Some w => match assoc t (d_schema w) with
-                       | Some cols => ans_eqb a (ARows cols (rows_of t (d_data w)))
-                       | None => is_error a
-                       end
-           | None => is_error a
-           end
-         | _ => match a with ARows _ _ | AHist _ _ => want_commit r v t a | _ => true end   (* refusing is fine; rows must be the right ones *)
-         end
-O    if revdb_denotes r v then want_commit r v t a
-    else match (norm_base r (fst v), snd v) with
-         | (BBranch b, []) =>                         (* dirty branch: `db/branch` is the branch's working set *)
-           match branch_working r b with
-           | Some w => match assoc t (d_schema w) with
-                       | Some cols => ans_eqb a (ARows cols (rows_of t (d_data w)))
-                       | None => is_error a
-                       end
-           | None => is_error a
-           end
-         | _ => match a with ARows _ _ | AHist _ _ => want_commit r v t a | _ => true end   (* refusing is fine; rows must be the right ones *)
-         end
-F    if revdb_denotes r v then want_commit r v t a
-    else match (norm_base r (fst v), snd v) with
-         | (BBranch b, []) =>                         (* dirty branch: `db/branch` is the branch's working set *)
-           match branch_working r b with
-           | Some w => match assoc t (d_schema w) with
-                       | Some cols => ans_eqb a (ARows cols (rows_of t (d_data w)))
-                       | None => is_error a
-                       end
-           | None => is_error a
-           end
-         | _ => match a with ARows _ _ | AHist _ _ => want_commit r v t a | _ => true end   (* refusing is fine; rows must be the right ones *)
-         end
-     if revdb_denotes r v then want_commit r v t a
-    else match (norm_base r (fst v), snd v) with
-         | (BBranch b, []) =>                         (* dirty branch: `db/branch` is the branch's working set *)
-           match branch_working r b with
-           | Some w => match assoc t (d_schema w) with
-                       | Some cols => ans_eqb a (ARows cols (rows_of t (d_data w)))
-                       | None => is_error a
-                       end
-           | None => is_error a
-           end
-         | _ => match a with ARows _ _ | AHist _ _ => want_commit r v t a | _ => true end   (* refusing is fine; rows must be the right ones *)
-         end
-'    if revdb_denotes r v then want_commit r v t a
-    else match (norm_base r (fst v), snd v) with
-         | (BBranch b, []) =>                         (* dirty branch: `db/branch` is the branch's working set *)
-           match branch_working r b with
-           | Some w => match assoc t (d_schema w) with
-                       | Some cols => ans_eqb a (ARows cols (rows_of t (d_data w)))
-                       | None => is_error a
-                       end
-           | None => is_error a
-           end
-         | _ => match a with ARows _ _ | AHist _ _ => want_commit r v t a | _ => true end   (* refusing is fine; rows must be the right ones *)
-         end
-<    if revdb_denotes r v then want_commit r v t a
-    else match (norm_base r (fst v), snd v) with
-         | (BBranch b, []) =>                         (* dirty branch: `db/branch` is the branch's working set *)
-           match branch_working r b with
-           | Some w => match assoc t (d_schema w) with
-                       | Some cols => ans_eqb a (ARows cols (rows_of t (d_data w)))
-                       | None => is_error a
-                       end
-           | None => is_error a
-           end
-         | _ => match a with ARows _ _ | AHist _ _ => want_commit r v t a | _ => true end   (* refusing is fine; rows must be the right ones *)
-         end
-r    if revdb_denotes r v then want_commit r v t a
-    else match (norm_base r (fst v), snd v) with
-         | (BBranch b, []) =>                         (* dirty branch: `db/branch` is the branch's working set *)
-           match branch_working r b with
-           | Some w => match assoc t (d_schema w) with
-                       | Some cols => ans_eqb a (ARows cols (rows_of t (d_data w)))
-                       | None => is_error a
-                       end
-           | None => is_error a
-           end
-         | _ => match a with ARows _ _ | AHist _ _ => want_commit r v t a | _ => true end   (* refusing is fine; rows must be the right ones *)
-         end
-e    if revdb_denotes r v then want_commit r v t a
-    else match (norm_base r (fst v), snd v) with
-         | (BBranch b, []) =>                         (* dirty branch: `db/branch` is the branch's working set *)
-           match branch_working r b with
-           | Some w => match assoc t (d_schema w) with
-                       | Some cols => ans_eqb a (ARows cols (rows_of t (d_data w)))
-                       | None => is_error a
-                       end
-           | None => is_error a
-           end
-         | _ => match a with ARows _ _ | AHist _ _ => want_commit r v t a | _ => true end   (* refusing is fine; rows must be the right ones *)
-         end
-v    if revdb_denotes r v then want_commit r v t a
-    else match (norm_base r (fst v), snd v) with
-         | (BBranch b, []) =>                         (* dirty branch: `db/branch` is the branch's working set *)
-           match branch_working r b with
-           | Some w => match assoc t (d_schema w) with
-                       | Some cols => ans_eqb a (ARows cols (rows_of t (d_data w)))
-                       | None => is_error a
-                       end
-           | None => is_error a
-           end
-         | _ => match a with ARows _ _ | AHist _ _ => want_commit r v t a | _ => true end   (* refusing is fine; rows must be the right ones *)
-         end
->    if revdb_denotes r v then want_commit r v t a
-    else match (norm_base r (fst v), snd v) with
-         | (BBranch b, []) =>                         (* dirty branch: `db/branch` is the branch's working set *)
-           match branch_working r b with
-           | Some w => match assoc t (d_schema w) with
-                       | Some cols => ans_eqb a (ARows cols (rows_of t (d_data w)))
-                       | None => is_error a
-                       end
-           | None => is_error a
-           end
-         | _ => match a with ARows _ _ | AHist _ _ => want_commit r v t a | _ => true end   (* refusing is fine; rows must be the right ones *)
-         end
-'    if revdb_denotes r v then want_commit r v t a
-    else match (norm_base r (fst v), snd v) with
-         | (BBranch b, []) =>                         (* dirty branch: `db/branch` is the branch's working set *)
-           match branch_working r b with
-           | Some w => match assoc t (d_schema w) with
-                       | Some cols => ans_eqb a (ARows cols (rows_of t (d_data w)))
-                       | None => is_error a
-                       end
-           | None => is_error a
-           end
-         | _ => match a with ARows _ _ | AHist _ _ => want_commit r v t a | _ => true end   (* refusing is fine; rows must be the right ones *)
-         end
-     if revdb_denotes r v then want_commit r v t a
-    else match (norm_base r (fst v), snd v) with
-         | (BBranch b, []) =>                         (* dirty branch: `db/branch` is the branch's working set *)
-           match branch_working r b with
-           | Some w => match assoc t (d_schema w) with
-                       | Some cols => ans_eqb a (ARows cols (rows_of t (d_data w)))
-                       | None => is_error a
-                       end
-           | None => is_error a
-           end
-         | _ => match a with ARows _ _ | AHist _ _ => want_commit r v t a | _ => true end   (* refusing is fine; rows must be the right ones *)
-         end
-*    if revdb_denotes r v then want_commit r v t a
-    else match (norm_base r (fst v), snd v) with
-         | (BBranch b, []) =>                         (* dirty branch: `db/branch` is the branch's working set *)
-           match branch_working r b with
-           | Some w => match assoc t (d_schema w) with
-                       | Some cols => ans_eqb a (ARows cols (rows_of t (d_data w)))
-                       | None => is_error a
-                       end
-           | None => is_error a
-           end
-         | _ => match a with ARows _ _ | AHist _ _ => want_commit r v t a | _ => true end   (* refusing is fine; rows must be the right ones *)
-         end
-)    if revdb_denotes r v then want_commit r v t a
-    else match (norm_base r (fst v), snd v) with
-         | (BBranch b, []) =>                         (* dirty branch: `db/branch` is the branch's working set *)
-           match branch_working r b with
-           | Some w => match assoc t (d_schema w) with
-                       | Some cols => ans_eqb a (ARows cols (rows_of t (d_data w)))
-                       | None => is_error a
-                       end
-           | None => is_error a
-           end
-         | _ => match a with ARows _ _ | AHist _ _ => want_commit r v t a | _ => true end   (* refusing is fine; rows must be the right ones *)
-         end
-
-    if revdb_denotes r v then want_commit r v t a
-    else match (norm_base r (fst v), snd v) with
-         | (BBranch b, []) =>                         (* dirty branch: `db/branch` is the branch's working set *)
-           match branch_working r b with
-           | Some w => match assoc t (d_schema w) with
-                       | Some cols => ans_eqb a (ARows cols (rows_of t (d_data w)))
-                       | None => is_error a
-                       end
-           | None => is_error a
-           end
-         | _ => match a with ARows _ _ | AHist _ _ => want_commit r v t a | _ => true end   (* refusing is fine; rows must be the right ones *)
-         end
-|    if revdb_denotes r v then want_commit r v t a
-    else match (norm_base r (fst v), snd v) with
-         | (BBranch b, []) =>                         (* dirty branch: `db/branch` is the branch's working set *)
-           match branch_working r b with
-           | Some w => match assoc t (d_schema w) with
-                       | Some cols => ans_eqb a (ARows cols (rows_of t (d_data w)))
-                       | None => is_error a
-                       end
-           | None => is_error a
-           end
-         | _ => match a with ARows _ _ | AHist _ _ => want_commit r v t a | _ => true end   (* refusing is fine; rows must be the right ones *)
-         end
-     if revdb_denotes r v then want_commit r v t a
-    else match (norm_base r (fst v), snd v) with
-         | (BBranch b, []) =>                         (* dirty branch: `db/branch` is the branch's working set *)
-           match branch_working r b with
-           | Some w => match assoc t (d_schema w) with
-                       | Some cols => ans_eqb a (ARows cols (rows_of t (d_data w)))
-                       | None => is_error a
-                       end
-           | None => is_error a
-           end
-         | _ => match a with ARows _ _ | AHist _ _ => want_commit r v t a | _ => true end   (* refusing is fine; rows must be the right ones *)
-         end
-Q    if revdb_denotes r v then want_commit r v t a
-    else match (norm_base r (fst v), snd v) with
-         | (BBranch b, []) =>                         (* dirty branch: `db/branch` is the branch's working set *)
-           match branch_working r b with
-           | Some w => match assoc t (d_schema w) with
-                       | Some cols => ans_eqb a (ARows cols (rows_of t (d_data w)))
-                       | None => is_error a
-                       end
-           | None => is_error a
-           end
-         | _ => match a with ARows _ _ | AHist _ _ => want_commit r v t a | _ => true end   (* refusing is fine; rows must be the right ones *)
-         end
-R    if revdb_denotes r v then want_commit r v t a
-    else match (norm_base r (fst v), snd v) with
-         | (BBranch b, []) =>                         (* dirty branch: `db/branch` is the branch's working set *)
-           match branch_working r b with
-           | Some w => match assoc t (d_schema w) with
-                       | Some cols => ans_eqb a (ARows cols (rows_of t (d_data w)))
-                       | None => is_error a
-                       end
-           | None => is_error a
-           end
-         | _ => match a with ARows _ _ | AHist _ _ => want_commit r v t a | _ => true end   (* refusing is fine; rows must be the right ones *)
-         end
-e    if revdb_denotes r v then want_commit r v t a
-    else match (norm_base r (fst v), snd v) with
-         | (BBranch b, []) =>                         (* dirty branch: `db/branch` is the branch's working set *)
-           match branch_working r b with
-           | Some w => match assoc t (d_schema w) with
-                       | Some cols => ans_eqb a (ARows cols (rows_of t (d_data w)))
-                       | None => is_error a
-                       end
-           | None => is_error a
-           end
-         | _ => match a with ARows _ _ | AHist _ _ => want_commit r v t a | _ => true end   (* refusing is fine; rows must be the right ones *)
-         end
-v    if revdb_denotes r v then want_commit r v t a
-    else match (norm_base r (fst v), snd v) with
-         | (BBranch b, []) =>                         (* dirty branch: `db/branch` is the branch's working set *)
-           match branch_working r b with
-           | Some w => match assoc t (d_schema w) with
-                       | Some cols => ans_eqb a (ARows cols (rows_of t (d_data w)))
-                       | None => is_error a
-                       end
-           | None => is_error a
-           end
-         | _ => match a with ARows _ _ | AHist _ _ => want_commit r v t a | _ => true end   (* refusing is fine; rows must be the right ones *)
-         end
-D    if revdb_denotes r v then want_commit r v t a
-    else match (norm_base r (fst v), snd v) with
-         | (BBranch b, []) =>                         (* dirty branch: `db/branch` is the branch's working set *)
-           match branch_working r b with
-           | Some w => match assoc t (d_schema w) with
-                       | Some cols => ans_eqb a (ARows cols (rows_of t (d_data w)))
-                       | None => is_error a
-                       end
-           | None => is_error a
-           end
-         | _ => match a with ARows _ _ | AHist _ _ => want_commit r v t a | _ => true end   (* refusing is fine; rows must be the right ones *)
-         end
-b    if revdb_denotes r v then want_commit r v t a
-    else match (norm_base r (fst v), snd v) with
-         | (BBranch b, []) =>                         (* dirty branch: `db/branch` is the branch's working set *)
-           match branch_working r b with
-           | Some w => match assoc t (d_schema w) with
-                       | Some cols => ans_eqb a (ARows cols (rows_of t (d_data w)))
-                       | None => is_error a
-                       end
-           | None => is_error a
-           end
-         | _ => match a with ARows _ _ | AHist _ _ => want_commit r v t a | _ => true end   (* refusing is fine; rows must be the right ones *)
-         end
-     if revdb_denotes r v then want_commit r v t a
-    else match (norm_base r (fst v), snd v) with
-         | (BBranch b, []) =>                         (* dirty branch: `db/branch` is the branch's working set *)
-           match branch_working r b with
-           | Some w => match assoc t (d_schema w) with
-                       | Some cols => ans_eqb a (ARows cols (rows_of t (d_data w)))
-                       | None => is_error a
-                       end
-           | None => is_error a
-           end
-         | _ => match a with ARows _ _ | AHist _ _ => want_commit r v t a | _ => true end   (* refusing is fine; rows must be the right ones *)
-         end
-(    if revdb_denotes r v then want_commit r v t a
-    else match (norm_base r (fst v), snd v) with
-         | (BBranch b, []) =>                         (* dirty branch: `db/branch` is the branch's working set *)
-           match branch_working r b with
-           | Some w => match assoc t (d_schema w) with
-                       | Some cols => ans_eqb a (ARows cols (rows_of t (d_data w)))
-                       | None => is_error a
-                       end
-           | None => is_error a
-           end
-         | _ => match a with ARows _ _ | AHist _ _ => want_commit r v t a | _ => true end   (* refusing is fine; rows must be the right ones *)
-         end
-v    if revdb_denotes r v then want_commit r v t a
-    else match (norm_base r (fst v), snd v) with
-         | (BBranch b, []) =>                         (* dirty branch: `db/branch` is the branch's working set *)
-           match branch_working r b with
-           | Some w => match assoc t (d_schema w) with
-                       | Some cols => ans_eqb a (ARows cols (rows_of t (d_data w)))
-                       | None => is_error a
-                       end
-           | None => is_error a
-           end
-         | _ => match a with ARows _ _ | AHist _ _ => want_commit r v t a | _ => true end   (* refusing is fine; rows must be the right ones *)
-         end
-     if revdb_denotes r v then want_commit r v t a
-    else match (norm_base r (fst v), snd v) with
-         | (BBranch b, []) =>                         (* dirty branch: `db/branch` is the branch's working set *)
-           match branch_working r b with
-           | Some w => match assoc t (d_schema w) with
-                       | Some cols => ans_eqb a (ARows cols (rows_of t (d_data w)))
-                       | None => is_error a
-                       end
-           | None => is_error a
-           end
-         | _ => match a with ARows _ _ | AHist _ _ => want_commit r v t a | _ => true end   (* refusing is fine; rows must be the right ones *)
-         end
-:    if revdb_denotes r v then want_commit r v t a
-    else match (norm_base r (fst v), snd v) with
-         | (BBranch b, []) =>                         (* dirty branch: `db/branch` is the branch's working set *)
-           match branch_working r b with
-           | Some w => match assoc t (d_schema w) with
-                       | Some cols => ans_eqb a (ARows cols (rows_of t (d_data w)))
-                       | None => is_error a
-                       end
-           | None => is_error a
-           end
-         | _ => match a with ARows _ _ | AHist _ _ => want_commit r v t a | _ => true end   (* refusing is fine; rows must be the right ones *)
-         end
-     if revdb_denotes r v then want_commit r v t a
-    else match (norm_base r (fst v), snd v) with
-         | (BBranch b, []) =>                         (* dirty branch: `db/branch` is the branch's working set *)
-           match branch_working r b with
-           | Some w => match assoc t (d_schema w) with
-                       | Some cols => ans_eqb a (ARows cols (rows_of t (d_data w)))
-                       | None => is_error a
-                       end
-           | None => is_error a
-           end
-         | _ => match a with ARows _ _ | AHist _ _ => want_commit r v t a | _ => true end   (* refusing is fine; rows must be the right ones *)
-         end
-r    if revdb_denotes r v then want_commit r v t a
-    else match (norm_base r (fst v), snd v) with
-         | (BBranch b, []) =>                         (* dirty branch: `db/branch` is the branch's working set *)
-           match branch_working r b with
-           | Some w => match assoc t (d_schema w) with
-                       | Some cols => ans_eqb a (ARows cols (rows_of t (d_data w)))
-                       | None => is_error a
-                       end
-           | None => is_error a
-           end
-         | _ => match a with ARows _ _ | AHist _ _ => want_commit r v t a | _ => true end   (* refusing is fine; rows must be the right ones *)
-         end
-e    if revdb_denotes r v then want_commit r v t a
-    else match (norm_base r (fst v), snd v) with
-         | (BBranch b, []) =>                         (* dirty branch: `db/branch` is the branch's working set *)
-           match branch_working r b with
-           | Some w => match assoc t (d_schema w) with
-                       | Some cols => ans_eqb a (ARows cols (rows_of t (d_data w)))
-                       | None => is_error a
-                       end
-           | None => is_error a
-           end
-         | _ => match a with ARows _ _ | AHist _ _ => want_commit r v t a | _ => true end   (* refusing is fine; rows must be the right ones *)
-         end
-v    if revdb_denotes r v then want_commit r v t a
-    else match (norm_base r (fst v), snd v) with
-         | (BBranch b, []) =>                         (* dirty branch: `db/branch` is the branch's working set *)
-           match branch_working r b with
-           | Some w => match assoc t (d_schema w) with
-                       | Some cols => ans_eqb a (ARows cols (rows_of t (d_data w)))
-                       | None => is_error a
-                       end
-           | None => is_error a
-           end
-         | _ => match a with ARows _ _ | AHist _ _ => want_commit r v t a | _ => true end   (* refusing is fine; rows must be the right ones *)
-         end
-)    if revdb_denotes r v then want_commit r v t a
-    else match (norm_base r (fst v), snd v) with
-         | (BBranch b, []) =>                         (* dirty branch: `db/branch` is the branch's working set *)
-           match branch_working r b with
-           | Some w => match assoc t (d_schema w) with
-                       | Some cols => ans_eqb a (ARows cols (rows_of t (d_data w)))
-                       | None => is_error a
-                       end
-           | None => is_error a
-           end
-         | _ => match a with ARows _ _ | AHist _ _ => want_commit r v t a | _ => true end   (* refusing is fine; rows must be the right ones *)
-         end
-     if revdb_denotes r v then want_commit r v t a
-    else match (norm_base r (fst v), snd v) with
-         | (BBranch b, []) =>                         (* dirty branch: `db/branch` is the branch's working set *)
-           match branch_working r b with
-           | Some w => match assoc t (d_schema w) with
-                       | Some cols => ans_eqb a (ARows cols (rows_of t (d_data w)))
-                       | None => is_error a
-                       end
-           | None => is_error a
-           end
-         | _ => match a with ARows _ _ | AHist _ _ => want_commit r v t a | _ => true end   (* refusing is fine; rows must be the right ones *)
-         end
-(    if revdb_denotes r v then want_commit r v t a
-    else match (norm_base r (fst v), snd v) with
-         | (BBranch b, []) =>                         (* dirty branch: `db/branch` is the branch's working set *)
-           match branch_working r b with
-           | Some w => match assoc t (d_schema w) with
-                       | Some cols => ans_eqb a (ARows cols (rows_of t (d_data w)))
-                       | None => is_error a
-                       end
-           | None => is_error a
-           end
-         | _ => match a with ARows _ _ | AHist _ _ => want_commit r v t a | _ => true end   (* refusing is fine; rows must be the right ones *)
-         end
-t    if revdb_denotes r v then want_commit r v t a
-    else match (norm_base r (fst v), snd v) with
-         | (BBranch b, []) =>                         (* dirty branch: `db/branch` is the branch's working set *)
-           match branch_working r b with
-           | Some w => match assoc t (d_schema w) with
-                       | Some cols => ans_eqb a (ARows cols (rows_of t (d_data w)))
-                       | None => is_error a
-                       end
-           | None => is_error a
-           end
-         | _ => match a with ARows _ _ | AHist _ _ => want_commit r v t a | _ => true end   (* refusing is fine; rows must be the right ones *)
-         end
-     if revdb_denotes r v then want_commit r v t a
-    else match (norm_base r (fst v), snd v) with
-         | (BBranch b, []) =>                         (* dirty branch: `db/branch` is the branch's working set *)
-           match branch_working r b with
-           | Some w => match assoc t (d_schema w) with
-                       | Some cols => ans_eqb a (ARows cols (rows_of t (d_data w)))
-                       | None => is_error a
-                       end
-           | None => is_error a
-           end
-         | _ => match a with ARows _ _ | AHist _ _ => want_commit r v t a | _ => true end   (* refusing is fine; rows must be the right ones *)
-         end
-:    if revdb_denotes r v then want_commit r v t a
-    else match (norm_base r (fst v), snd v) with
-         | (BBranch b, []) =>                         (* dirty branch: `db/branch` is the branch's working set *)
-           match branch_working r b with
-           | Some w => match assoc t (d_schema w) with
-                       | Some cols => ans_eqb a (ARows cols (rows_of t (d_data w)))
-                       | None => is_error a
-                       end
-           | None => is_error a
-           end
-         | _ => match a with ARows _ _ | AHist _ _ => want_commit r v t a | _ => true end   (* refusing is fine; rows must be the right ones *)
-         end
-     if revdb_denotes r v then want_commit r v t a
-    else match (norm_base r (fst v), snd v) with
-         | (BBranch b, []) =>                         (* dirty branch: `db/branch` is the branch's working set *)
-           match branch_working r b with
-           | Some w => match assoc t (d_schema w) with
-                       | Some cols => ans_eqb a (ARows cols (rows_of t (d_data w)))
-                       | None => is_error a
-                       end
-           | None => is_error a
-           end
-         | _ => match a with ARows _ _ | AHist _ _ => want_commit r v t a | _ => true end   (* refusing is fine; rows must be the right ones *)
-         end
-N    if revdb_denotes r v then want_commit r v t a
-    else match (norm_base r (fst v), snd v) with
-         | (BBranch b, []) =>                         (* dirty branch: `db/branch` is the branch's working set *)
-           match branch_working r b with
-           | Some w => match assoc t (d_schema w) with
-                       | Some cols => ans_eqb a (ARows cols (rows_of t (d_data w)))
-                       | None => is_error a
-                       end
-           | None => is_error a
-           end
-         | _ => match a with ARows _ _ | AHist _ _ => want_commit r v t a | _ => true end   (* refusing is fine; rows must be the right ones *)
-         end
-)    if revdb_denotes r v then want_commit r v t a
-    else match (norm_base r (fst v), snd v) with
-         | (BBranch b, []) =>                         (* dirty branch: `db/branch` is the branch's working set *)
-           match branch_working r b with
-           | Some w => match assoc t (d_schema w) with
-                       | Some cols => ans_eqb a (ARows cols (rows_of t (d_data w)))
-                       | None => is_error a
-                       end
-           | None => is_error a
-           end
-         | _ => match a with ARows _ _ | AHist _ _ => want_commit r v t a | _ => true end   (* refusing is fine; rows must be the right ones *)
-         end
-     if revdb_denotes r v then want_commit r v t a
-    else match (norm_base r (fst v), snd v) with
-         | (BBranch b, []) =>                         (* dirty branch: `db/branch` is the branch's working set *)
-           match branch_working r b with
-           | Some w => match assoc t (d_schema w) with
-                       | Some cols => ans_eqb a (ARows cols (rows_of t (d_data w)))
-                       | None => is_error a
-                       end
-           | None => is_error a
-           end
-         | _ => match a with ARows _ _ | AHist _ _ => want_commit r v t a | _ => true end   (* refusing is fine; rows must be the right ones *)
-         end
-     if revdb_denotes r v then want_commit r v t a
-    else match (norm_base r (fst v), snd v) with
-         | (BBranch b, []) =>                         (* dirty branch: `db/branch` is the branch's working set *)
-           match branch_working r b with
-           | Some w => match assoc t (d_schema w) with
-                       | Some cols => ans_eqb a (ARows cols (rows_of t (d_data w)))
-                       | None => is_error a
-                       end
-           | None => is_error a
-           end
-         | _ => match a with ARows _ _ | AHist _ _ => want_commit r v t a | _ => true end   (* refusing is fine; rows must be the right ones *)
-         end
-     if revdb_denotes r v then want_commit r v t a
-    else match (norm_base r (fst v), snd v) with
-         | (BBranch b, []) =>                         (* dirty branch: `db/branch` is the branch's working set *)
-           match branch_working r b with
-           | Some w => match assoc t (d_schema w) with
-                       | Some cols => ans_eqb a (ARows cols (rows_of t (d_data w)))
-                       | None => is_error a
-                       end
-           | None => is_error a
-           end
-         | _ => match a with ARows _ _ | AHist _ _ => want_commit r v t a | _ => true end   (* refusing is fine; rows must be the right ones *)
-         end
-     if revdb_denotes r v then want_commit r v t a
-    else match (norm_base r (fst v), snd v) with
-         | (BBranch b, []) =>                         (* dirty branch: `db/branch` is the branch's working set *)
-           match branch_working r b with
-           | Some w => match assoc t (d_schema w) with
-                       | Some cols => ans_eqb a (ARows cols (rows_of t (d_data w)))
-                       | None => is_error a
-                       end
-           | None => is_error a
-           end
-         | _ => match a with ARows _ _ | AHist _ _ => want_commit r v t a | _ => true end   (* refusing is fine; rows must be the right ones *)
-         end
-     if revdb_denotes r v then want_commit r v t a
-    else match (norm_base r (fst v), snd v) with
-         | (BBranch b, []) =>                         (* dirty branch: `db/branch` is the branch's working set *)
-           match branch_working r b with
-           | Some w => match assoc t (d_schema w) with
-                       | Some cols => ans_eqb a (ARows cols (rows_of t (d_data w)))
-                       | None => is_error a
-                       end
-           | None => is_error a
-           end
-         | _ => match a with ARows _ _ | AHist _ _ => want_commit r v t a | _ => true end   (* refusing is fine; rows must be the right ones *)
-         end
-     if revdb_denotes r v then want_commit r v t a
-    else match (norm_base r (fst v), snd v) with
-         | (BBranch b, []) =>                         (* dirty branch: `db/branch` is the branch's working set *)
-           match branch_working r b with
-           | Some w => match assoc t (d_schema w) with
-                       | Some cols => ans_eqb a (ARows cols (rows_of t (d_data w)))
-                       | None => is_error a
-                       end
-           | None => is_error a
-           end
-         | _ => match a with ARows _ _ | AHist _ _ => want_commit r v t a | _ => true end   (* refusing is fine; rows must be the right ones *)
-         end
-     if revdb_denotes r v then want_commit r v t a
-    else match (norm_base r (fst v), snd v) with
-         | (BBranch b, []) =>                         (* dirty branch: `db/branch` is the branch's working set *)
-           match branch_working r b with
-           | Some w => match assoc t (d_schema w) with
-                       | Some cols => ans_eqb a (ARows cols (rows_of t (d_data w)))
-                       | None => is_error a
-                       end
-           | None => is_error a
-           end
-         | _ => match a with ARows _ _ | AHist _ _ => want_commit r v t a | _ => true end   (* refusing is fine; rows must be the right ones *)
-         end
-(    if revdb_denotes r v then want_commit r v t a
-    else match (norm_base r (fst v), snd v) with
-         | (BBranch b, []) =>                         (* dirty branch: `db/branch` is the branch's working set *)
-           match branch_working r b with
-           | Some w => match assoc t (d_schema w) with
-                       | Some cols => ans_eqb a (ARows cols (rows_of t (d_data w)))
-                       | None => is_error a
-                       end
-           | None => is_error a
-           end
-         | _ => match a with ARows _ _ | AHist _ _ => want_commit r v t a | _ => true end   (* refusing is fine; rows must be the right ones *)
-         end
-*    if revdb_denotes r v then want_commit r v t a
-    else match (norm_base r (fst v), snd v) with
-         | (BBranch b, []) =>                         (* dirty branch: `db/branch` is the branch's working set *)
-           match branch_working r b with
-           | Some w => match assoc t (d_schema w) with
-                       | Some cols => ans_eqb a (ARows cols (rows_of t (d_data w)))
-                       | None => is_error a
-                       end
-           | None => is_error a
-           end
-         | _ => match a with ARows _ _ | AHist _ _ => want_commit r v t a | _ => true end   (* refusing is fine; rows must be the right ones *)
-         end
-     if revdb_denotes r v then want_commit r v t a
-    else match (norm_base r (fst v), snd v) with
-         | (BBranch b, []) =>                         (* dirty branch: `db/branch` is the branch's working set *)
-           match branch_working r b with
-           | Some w => match assoc t (d_schema w) with
-                       | Some cols => ans_eqb a (ARows cols (rows_of t (d_data w)))
-                       | None => is_error a
-                       end
-           | None => is_error a
-           end
-         | _ => match a with ARows _ _ | AHist _ _ => want_commit r v t a | _ => true end   (* refusing is fine; rows must be the right ones *)
-         end
-S    if revdb_denotes r v then want_commit r v t a
-    else match (norm_base r (fst v), snd v) with
-         | (BBranch b, []) =>                         (* dirty branch: `db/branch` is the branch's working set *)
-           match branch_working r b with
-           | Some w => match assoc t (d_schema w) with
-                       | Some cols => ans_eqb a (ARows cols (rows_of t (d_data w)))
-                       | None => is_error a
-                       end
-           | None => is_error a
-           end
-         | _ => match a with ARows _ _ | AHist _ _ => want_commit r v t a | _ => true end   (* refusing is fine; rows must be the right ones *)
-         end
-E    if revdb_denotes r v then want_commit r v t a
-    else match (norm_base r (fst v), snd v) with
-         | (BBranch b, []) =>                         (* dirty branch: `db/branch` is the branch's working set *)
-           match branch_working r b with
-           | Some w => match assoc t (d_schema w) with
-                       | Some cols => ans_eqb a (ARows cols (rows_of t (d_data w)))
-                       | None => is_error a
-                       end
-           | None => is_error a
-           end
-         | _ => match a with ARows _ _ | AHist _ _ => want_commit r v t a | _ => true end   (* refusing is fine; rows must be the right ones *)
-         end
-L    if revdb_denotes r v then want_commit r v t a
-    else match (norm_base r (fst v), snd v) with
-         | (BBranch b, []) =>                         (* dirty branch: `db/branch` is the branch's working set *)
-           match branch_working r b with
-           | Some w => match assoc t (d_schema w) with
-                       | Some cols => ans_eqb a (ARows cols (rows_of t (d_data w)))
-                       | None => is_error a
-                       end
-           | None => is_error a
-           end
-         | _ => match a with ARows _ _ | AHist _ _ => want_commit r v t a | _ => true end   (* refusing is fine; rows must be the right ones *)
-         end
-E    if revdb_denotes r v then want_commit r v t a
-    else match (norm_base r (fst v), snd v) with
-         | (BBranch b, []) =>                         (* dirty branch: `db/branch` is the branch's working set *)
-           match branch_working r b with
-           | Some w => match assoc t (d_schema w) with
-                       | Some cols => ans_eqb a (ARows cols (rows_of t (d_data w)))
-                       | None => is_error a
-                       end
-           | None => is_error a
-           end
-         | _ => match a with ARows _ _ | AHist _ _ => want_commit r v t a | _ => true end   (* refusing is fine; rows must be the right ones *)
-         end
-C    if revdb_denotes r v then want_commit r v t a
-    else match (norm_base r (fst v), snd v) with
-         | (BBranch b, []) =>                         (* dirty branch: `db/branch` is the branch's working set *)
-           match branch_working r b with
-           | Some w => match assoc t (d_schema w) with
-                       | Some cols => ans_eqb a (ARows cols (rows_of t (d_data w)))
-                       | None => is_error a
-                       end
-           | None => is_error a
-           end
-         | _ => match a with ARows _ _ | AHist _ _ => want_commit r v t a | _ => true end   (* refusing is fine; rows must be the right ones *)
-         end
-T    if revdb_denotes r v then want_commit r v t a
-    else match (norm_base r (fst v), snd v) with
-         | (BBranch b, []) =>                         (* dirty branch: `db/branch` is the branch's working set *)
-           match branch_working r b with
-           | Some w => match assoc t (d_schema w) with
-                       | Some cols => ans_eqb a (ARows cols (rows_of t (d_data w)))
-                       | None => is_error a
-                       end
-           | None => is_error a
-           end
-         | _ => match a with ARows _ _ | AHist _ _ => want_commit r v t a | _ => true end   (* refusing is fine; rows must be the right ones *)
-         end
-     if revdb_denotes r v then want_commit r v t a
-    else match (norm_base r (fst v), snd v) with
-         | (BBranch b, []) =>                         (* dirty branch: `db/branch` is the branch's working set *)
-           match branch_working r b with
-           | Some w => match assoc t (d_schema w) with
-                       | Some cols => ans_eqb a (ARows cols (rows_of t (d_data w)))
-                       | None => is_error a
-                       end
-           | None => is_error a
-           end
-         | _ => match a with ARows _ _ | AHist _ _ => want_commit r v t a | _ => true end   (* refusing is fine; rows must be the right ones *)
-         end
-*    if revdb_denotes r v then want_commit r v t a
-    else match (norm_base r (fst v), snd v) with
-         | (BBranch b, []) =>                         (* dirty branch: `db/branch` is the branch's working set *)
-           match branch_working r b with
-           | Some w => match assoc t (d_schema w) with
-                       | Some cols => ans_eqb a (ARows cols (rows_of t (d_data w)))
-                       | None => is_error a
-                       end
-           | None => is_error a
-           end
-         | _ => match a with ARows _ _ | AHist _ _ => want_commit r v t a | _ => true end   (* refusing is fine; rows must be the right ones *)
-         end
-     if revdb_denotes r v then want_commit r v t a
-    else match (norm_base r (fst v), snd v) with
-         | (BBranch b, []) =>                         (* dirty branch: `db/branch` is the branch's working set *)
-           match branch_working r b with
-           | Some w => match assoc t (d_schema w) with
-                       | Some cols => ans_eqb a (ARows cols (rows_of t (d_data w)))
-                       | None => is_error a
-                       end
-           | None => is_error a
-           end
-         | _ => match a with ARows _ _ | AHist _ _ => want_commit r v t a | _ => true end   (* refusing is fine; rows must be the right ones *)
-         end
-F    if revdb_denotes r v then want_commit r v t a
-    else match (norm_base r (fst v), snd v) with
-         | (BBranch b, []) =>                         (* dirty branch: `db/branch` is the branch's working set *)
-           match branch_working r b with
-           | Some w => match assoc t (d_schema w) with
-                       | Some cols => ans_eqb a (ARows cols (rows_of t (d_data w)))
-                       | None => is_error a
-                       end
-           | None => is_error a
-           end
-         | _ => match a with ARows _ _ | AHist _ _ => want_commit r v t a | _ => true end   (* refusing is fine; rows must be the right ones *)
-         end
-R    if revdb_denotes r v then want_commit r v t a
-    else match (norm_base r (fst v), snd v) with
-         | (BBranch b, []) =>                         (* dirty branch: `db/branch` is the branch's working set *)
-           match branch_working r b with
-           | Some w => match assoc t (d_schema w) with
-                       | Some cols => ans_eqb a (ARows cols (rows_of t (d_data w)))
-                       | None => is_error a
-                       end
-           | None => is_error a
-           end
-         | _ => match a with ARows _ _ | AHist _ _ => want_commit r v t a | _ => true end   (* refusing is fine; rows must be the right ones *)
-         end
-O    if revdb_denotes r v then want_commit r v t a
-    else match (norm_base r (fst v), snd v) with
-         | (BBranch b, []) =>                         (* dirty branch: `db/branch` is the branch's working set *)
-           match branch_working r b with
-           | Some w => match assoc t (d_schema w) with
-                       | Some cols => ans_eqb a (ARows cols (rows_of t (d_data w)))
-                       | None => is_error a
-                       end
-           | None => is_error a
-           end
-         | _ => match a with ARows _ _ | AHist _ _ => want_commit r v t a | _ => true end   (* refusing is fine; rows must be the right ones *)
-         end
-M    if revdb_denotes r v then want_commit r v t a
-    else match (norm_base r (fst v), snd v) with
-         | (BBranch b, []) =>                         (* dirty branch: `db/branch` is the branch's working set *)
-           match branch_working r b with
-           | Some w => match assoc t (d_schema w) with
-                       | Some cols => ans_eqb a (ARows cols (rows_of t (d_data w)))
-                       | None => is_error a
-                       end
-           | None => is_error a
-           end
-         | _ => match a with ARows _ _ | AHist _ _ => want_commit r v t a | _ => true end   (* refusing is fine; rows must be the right ones *)
-         end
-     if revdb_denotes r v then want_commit r v t a
-    else match (norm_base r (fst v), snd v) with
-         | (BBranch b, []) =>                         (* dirty branch: `db/branch` is the branch's working set *)
-           match branch_working r b with
-           | Some w => match assoc t (d_schema w) with
-                       | Some cols => ans_eqb a (ARows cols (rows_of t (d_data w)))
-                       | None => is_error a
-                       end
-           | None => is_error a
-           end
-         | _ => match a with ARows _ _ | AHist _ _ => want_commit r v t a | _ => true end   (* refusing is fine; rows must be the right ones *)
-         end
-`    if revdb_denotes r v then want_commit r v t a
-    else match (norm_base r (fst v), snd v) with
-         | (BBranch b, []) =>                         (* dirty branch: `db/branch` is the branch's working set *)
-           match branch_working r b with
-           | Some w => match assoc t (d_schema w) with
-                       | Some cols => ans_eqb a (ARows cols (rows_of t (d_data w)))
-                       | None => is_error a
-                       end
-           | None => is_error a
-           end
-         | _ => match a with ARows _ _ | AHist _ _ => want_commit r v t a | _ => true end   (* refusing is fine; rows must be the right ones *)
-         end
-d    if revdb_denotes r v then want_commit r v t a
-    else match (norm_base r (fst v), snd v) with
-         | (BBranch b, []) =>                         (* dirty branch: `db/branch` is the branch's working set *)
-           match branch_working r b with
-           | Some w => match assoc t (d_schema w) with
-                       | Some cols => ans_eqb a (ARows cols (rows_of t (d_data w)))
-                       | None => is_error a
-                       end
-           | None => is_error a
-           end
-         | _ => match a with ARows _ _ | AHist _ _ => want_commit r v t a | _ => true end   (* refusing is fine; rows must be the right ones *)
-         end
-b    if revdb_denotes r v then want_commit r v t a
-    else match (norm_base r (fst v), snd v) with
-         | (BBranch b, []) =>                         (* dirty branch: `db/branch` is the branch's working set *)
-           match branch_working r b with
-           | Some w => match assoc t (d_schema w) with
-                       | Some cols => ans_eqb a (ARows cols (rows_of t (d_data w)))
-                       | None => is_error a
-                       end
-           | None => is_error a
-           end
-         | _ => match a with ARows _ _ | AHist _ _ => want_commit r v t a | _ => true end   (* refusing is fine; rows must be the right ones *)
-         end
-/    if revdb_denotes r v then want_commit r v t a
-    else match (norm_base r (fst v), snd v) with
-         | (BBranch b, []) =>                         (* dirty branch: `db/branch` is the branch's working set *)
-           match branch_working r b with
-           | Some w => match assoc t (d_schema w) with
-                       | Some cols => ans_eqb a (ARows cols (rows_of t (d_data w)))
-                       | None => is_error a
-                       end
-           | None => is_error a
-           end
-         | _ => match a with ARows _ _ | AHist _ _ => want_commit r v t a | _ => true end   (* refusing is fine; rows must be the right ones *)
-         end
-<    if revdb_denotes r v then want_commit r v t a
-    else match (norm_base r (fst v), snd v) with
-         | (BBranch b, []) =>                         (* dirty branch: `db/branch` is the branch's working set *)
-           match branch_working r b with
-           | Some w => match assoc t (d_schema w) with
-                       | Some cols => ans_eqb a (ARows cols (rows_of t (d_data w)))
-                       | None => is_error a
-                       end
-           | None => is_error a
-           end
-         | _ => match a with ARows _ _ | AHist _ _ => want_commit r v t a | _ => true end   (* refusing is fine; rows must be the right ones *)
-         end
-r    if revdb_denotes r v then want_commit r v t a
-    else match (norm_base r (fst v), snd v) with
-         | (BBranch b, []) =>                         (* dirty branch: `db/branch` is the branch's working set *)
-           match branch_working r b with
-           | Some w => match assoc t (d_schema w) with
-                       | Some cols => ans_eqb a (ARows cols (rows_of t (d_data w)))
-                       | None => is_error a
-                       end
-           | None => is_error a
-           end
-         | _ => match a with ARows _ _ | AHist _ _ => want_commit r v t a | _ => true end   (* refusing is fine; rows must be the right ones *)
-         end
-e    if revdb_denotes r v then want_commit r v t a
-    else match (norm_base r (fst v), snd v) with
-         | (BBranch b, []) =>                         (* dirty branch: `db/branch` is the branch's working set *)
-           match branch_working r b with
-           | Some w => match assoc t (d_schema w) with
-                       | Some cols => ans_eqb a (ARows cols (rows_of t (d_data w)))
-                       | None => is_error a
-                       end
-           | None => is_error a
-           end
-         | _ => match a with ARows _ _ | AHist _ _ => want_commit r v t a | _ => true end   (* refusing is fine; rows must be the right ones *)
-         end
-v    if revdb_denotes r v then want_commit r v t a
-    else match (norm_base r (fst v), snd v) with
-         | (BBranch b, []) =>                         (* dirty branch: `db/branch` is the branch's working set *)
-           match branch_working r b with
-           | Some w => match assoc t (d_schema w) with
-                       | Some cols => ans_eqb a (ARows cols (rows_of t (d_data w)))
-                       | None => is_error a
-                       end
-           | None => is_error a
-           end
-         | _ => match a with ARows _ _ | AHist _ _ => want_commit r v t a | _ => true end   (* refusing is fine; rows must be the right ones *)
-         end
->    if revdb_denotes r v then want_commit r v t a
-    else match (norm_base r (fst v), snd v) with
-         | (BBranch b, []) =>                         (* dirty branch: `db/branch` is the branch's working set *)
-           match branch_working r b with
-           | Some w => match assoc t (d_schema w) with
-                       | Some cols => ans_eqb a (ARows cols (rows_of t (d_data w)))
-                       | None => is_error a
-                       end
-           | None => is_error a
-           end
-         | _ => match a with ARows _ _ | AHist _ _ => want_commit r v t a | _ => true end   (* refusing is fine; rows must be the right ones *)
-         end
-`    if revdb_denotes r v then want_commit r v t a
-    else match (norm_base r (fst v), snd v) with
-         | (BBranch b, []) =>                         (* dirty branch: `db/branch` is the branch's working set *)
-           match branch_working r b with
-           | Some w => match assoc t (d_schema w) with
-                       | Some cols => ans_eqb a (ARows cols (rows_of t (d_data w)))
-                       | None => is_error a
-                       end
-           | None => is_error a
-           end
-         | _ => match a with ARows _ _ | AHist _ _ => want_commit r v t a | _ => true end   (* refusing is fine; rows must be the right ones *)
-         end
-.    if revdb_denotes r v then want_commit r v t a
-    else match (norm_base r (fst v), snd v) with
-         | (BBranch b, []) =>                         (* dirty branch: `db/branch` is the branch's working set *)
-           match branch_working r b with
-           | Some w => match assoc t (d_schema w) with
-                       | Some cols => ans_eqb a (ARows cols (rows_of t (d_data w)))
-                       | None => is_error a
-                       end
-           | None => is_error a
-           end
-         | _ => match a with ARows _ _ | AHist _ _ => want_commit r v t a | _ => true end   (* refusing is fine; rows must be the right ones *)
-         end
-t    if revdb_denotes r v then want_commit r v t a
-    else match (norm_base r (fst v), snd v) with
-         | (BBranch b, []) =>                         (* dirty branch: `db/branch` is the branch's working set *)
-           match branch_working r b with
-           | Some w => match assoc t (d_schema w) with
-                       | Some cols => ans_eqb a (ARows cols (rows_of t (d_data w)))
-                       | None => is_error a
-                       end
-           | None => is_error a
-           end
-         | _ => match a with ARows _ _ | AHist _ _ => want_commit r v t a | _ => true end   (* refusing is fine; rows must be the right ones *)
-         end
-     if revdb_denotes r v then want_commit r v t a
-    else match (norm_base r (fst v), snd v) with
-         | (BBranch b, []) =>                         (* dirty branch: `db/branch` is the branch's working set *)
-           match branch_working r b with
-           | Some w => match assoc t (d_schema w) with
-                       | Some cols => ans_eqb a (ARows cols (rows_of t (d_data w)))
-                       | None => is_error a
-                       end
-           | None => is_error a
-           end
-         | _ => match a with ARows _ _ | AHist _ _ => want_commit r v t a | _ => true end   (* refusing is fine; rows must be the right ones *)
-         end
-*    if revdb_denotes r v then want_commit r v t a
-    else match (norm_base r (fst v), snd v) with
-         | (BBranch b, []) =>                         (* dirty branch: `db/branch` is the branch's working set *)
-           match branch_working r b with
-           | Some w => match assoc t (d_schema w) with
-                       | Some cols => ans_eqb a (ARows cols (rows_of t (d_data w)))
-                       | None => is_error a
-                       end
-           | None => is_error a
-           end
-         | _ => match a with ARows _ _ | AHist _ _ => want_commit r v t a | _ => true end   (* refusing is fine; rows must be the right ones *)
-         end
-)    if revdb_denotes r v then want_commit r v t a
-    else match (norm_base r (fst v), snd v) with
-         | (BBranch b, []) =>                         (* dirty branch: `db/branch` is the branch's working set *)
-           match branch_working r b with
-           | Some w => match assoc t (d_schema w) with
-                       | Some cols => ans_eqb a (ARows cols (rows_of t (d_data w)))
-                       | None => is_error a
-                       end
-           | None => is_error a
-           end
-         | _ => match a with ARows _ _ | AHist _ _ => want_commit r v t a | _ => true end   (* refusing is fine; rows must be the right ones *)
-         end
-
-    if revdb_denotes r v then want_commit r v t a
-    else match (norm_base r (fst v), snd v) with
-         | (BBranch b, []) =>                         (* dirty branch: `db/branch` is the branch's working set *)
-           match branch_working r b with
-           | Some w => match assoc t (d_schema w) with
-                       | Some cols => ans_eqb a (ARows cols (rows_of t (d_data w)))
-                       | None => is_error a
-                       end
-           | None => is_error a
-           end
-         | _ => match a with ARows _ _ | AHist _ _ => want_commit r v t a | _ => true end   (* refusing is fine; rows must be the right ones *)
-         end
-|    if revdb_denotes r v then want_commit r v t a
-    else match (norm_base r (fst v), snd v) with
-         | (BBranch b, []) =>                         (* dirty branch: `db/branch` is the branch's working set *)
-           match branch_working r b with
-           | Some w => match assoc t (d_schema w) with
-                       | Some cols => ans_eqb a (ARows cols (rows_of t (d_data w)))
-                       | None => is_error a
-                       end
-           | None => is_error a
-           end
-         | _ => match a with ARows _ _ | AHist _ _ => want_commit r v t a | _ => true end   (* refusing is fine; rows must be the right ones *)
-         end
-     if revdb_denotes r v then want_commit r v t a
-    else match (norm_base r (fst v), snd v) with
-         | (BBranch b, []) =>                         (* dirty branch: `db/branch` is the branch's working set *)
-           match branch_working r b with
-           | Some w => match assoc t (d_schema w) with
-                       | Some cols => ans_eqb a (ARows cols (rows_of t (d_data w)))
-                       | None => is_error a
-                       end
-           | None => is_error a
-           end
-         | _ => match a with ARows _ _ | AHist _ _ => want_commit r v t a | _ => true end   (* refusing is fine; rows must be the right ones *)
-         end
-Q    if revdb_denotes r v then want_commit r v t a
-    else match (norm_base r (fst v), snd v) with
-         | (BBranch b, []) =>                         (* dirty branch: `db/branch` is the branch's working set *)
-           match branch_working r b with
-           | Some w => match assoc t (d_schema w) with
-                       | Some cols => ans_eqb a (ARows cols (rows_of t (d_data w)))
-                       | None => is_error a
-                       end
-           | None => is_error a
-           end
-         | _ => match a with ARows _ _ | AHist _ _ => want_commit r v t a | _ => true end   (* refusing is fine; rows must be the right ones *)
-         end
-U    if revdb_denotes r v then want_commit r v t a
-    else match (norm_base r (fst v), snd v) with
-         | (BBranch b, []) =>                         (* dirty branch: `db/branch` is the branch's working set *)
-           match branch_working r b with
-           | Some w => match assoc t (d_schema w) with
-                       | Some cols => ans_eqb a (ARows cols (rows_of t (d_data w)))
-                       | None => is_error a
-                       end
-           | None => is_error a
-           end
-         | _ => match a with ARows _ _ | AHist _ _ => want_commit r v t a | _ => true end   (* refusing is fine; rows must be the right ones *)
-         end
-s    if revdb_denotes r v then want_commit r v t a
-    else match (norm_base r (fst v), snd v) with
-         | (BBranch b, []) =>                         (* dirty branch: `db/branch` is the branch's working set *)
-           match branch_working r b with
-           | Some w => match assoc t (d_schema w) with
-                       | Some cols => ans_eqb a (ARows cols (rows_of t (d_data w)))
-                       | None => is_error a
-                       end
-           | None => is_error a
-           end
-         | _ => match a with ARows _ _ | AHist _ _ => want_commit r v t a | _ => true end   (* refusing is fine; rows must be the right ones *)
-         end
-e    if revdb_denotes r v then want_commit r v t a
-    else match (norm_base r (fst v), snd v) with
-         | (BBranch b, []) =>                         (* dirty branch: `db/branch` is the branch's working set *)
-           match branch_working r b with
-           | Some w => match assoc t (d_schema w) with
-                       | Some cols => ans_eqb a (ARows cols (rows_of t (d_data w)))
-                       | None => is_error a
-                       end
-           | None => is_error a
-           end
-         | _ => match a with ARows _ _ | AHist _ _ => want_commit r v t a | _ => true end   (* refusing is fine; rows must be the right ones *)
-         end
-R    if revdb_denotes r v then want_commit r v t a
-    else match (norm_base r (fst v), snd v) with
-         | (BBranch b, []) =>                         (* dirty branch: `db/branch` is the branch's working set *)
-           match branch_working r b with
-           | Some w => match assoc t (d_schema w) with
-                       | Some cols => ans_eqb a (ARows cols (rows_of t (d_data w)))
-                       | None => is_error a
-                       end
-           | None => is_error a
-           end
-         | _ => match a with ARows _ _ | AHist _ _ => want_commit r v t a | _ => true end   (* refusing is fine; rows must be the right ones *)
-         end
-e    if revdb_denotes r v then want_commit r v t a
-    else match (norm_base r (fst v), snd v) with
-         | (BBranch b, []) =>                         (* dirty branch: `db/branch` is the branch's working set *)
-           match branch_working r b with
-           | Some w => match assoc t (d_schema w) with
-                       | Some cols => ans_eqb a (ARows cols (rows_of t (d_data w)))
-                       | None => is_error a
-                       end
-           | None => is_error a
-           end
-         | _ => match a with ARows _ _ | AHist _ _ => want_commit r v t a | _ => true end   (* refusing is fine; rows must be the right ones *)
-         end
-v    if revdb_denotes r v then want_commit r v t a
-    else match (norm_base r (fst v), snd v) with
-         | (BBranch b, []) =>                         (* dirty branch: `db/branch` is the branch's working set *)
-           match branch_working r b with
-           | Some w => match assoc t (d_schema w) with
-                       | Some cols => ans_eqb a (ARows cols (rows_of t (d_data w)))
-                       | None => is_error a
-                       end
-           | None => is_error a
-           end
-         | _ => match a with ARows _ _ | AHist _ _ => want_commit r v t a | _ => true end   (* refusing is fine; rows must be the right ones *)
-         end
-D    if revdb_denotes r v then want_commit r v t a
-    else match (norm_base r (fst v), snd v) with
-         | (BBranch b, []) =>                         (* dirty branch: `db/branch` is the branch's working set *)
-           match branch_working r b with
-           | Some w => match assoc t (d_schema w) with
-                       | Some cols => ans_eqb a (ARows cols (rows_of t (d_data w)))
-                       | None => is_error a
-                       end
-           | None => is_error a
-           end
-         | _ => match a with ARows _ _ | AHist _ _ => want_commit r v t a | _ => true end   (* refusing is fine; rows must be the right ones *)
-         end
-b    if revdb_denotes r v then want_commit r v t a
-    else match (norm_base r (fst v), snd v) with
-         | (BBranch b, []) =>                         (* dirty branch: `db/branch` is the branch's working set *)
-           match branch_working r b with
-           | Some w => match assoc t (d_schema w) with
-                       | Some cols => ans_eqb a (ARows cols (rows_of t (d_data w)))
-                       | None => is_error a
-                       end
-           | None => is_error a
-           end
-         | _ => match a with ARows _ _ | AHist _ _ => want_commit r v t a | _ => true end   (* refusing is fine; rows must be the right ones *)
-         end
-     if revdb_denotes r v then want_commit r v t a
-    else match (norm_base r (fst v), snd v) with
-         | (BBranch b, []) =>                         (* dirty branch: `db/branch` is the branch's working set *)
-           match branch_working r b with
-           | Some w => match assoc t (d_schema w) with
-                       | Some cols => ans_eqb a (ARows cols (rows_of t (d_data w)))
-                       | None => is_error a
-                       end
-           | None => is_error a
-           end
-         | _ => match a with ARows _ _ | AHist _ _ => want_commit r v t a | _ => true end   (* refusing is fine; rows must be the right ones *)
-         end
-(    if revdb_denotes r v then want_commit r v t a
-    else match (norm_base r (fst v), snd v) with
-         | (BBranch b, []) =>                         (* dirty branch: `db/branch` is the branch's working set *)
-           match branch_working r b with
-           | Some w => match assoc t (d_schema w) with
-                       | Some cols => ans_eqb a (ARows cols (rows_of t (d_data w)))
-                       | None => is_error a
-                       end
-           | None => is_error a
-           end
-         | _ => match a with ARows _ _ | AHist _ _ => want_commit r v t a | _ => true end   (* refusing is fine; rows must be the right ones *)
-         end
-v    if revdb_denotes r v then want_commit r v t a
-    else match (norm_base r (fst v), snd v) with
-         | (BBranch b, []) =>                         (* dirty branch: `db/branch` is the branch's working set *)
-           match branch_working r b with
-           | Some w => match assoc t (d_schema w) with
-                       | Some cols => ans_eqb a (ARows cols (rows_of t (d_data w)))
-                       | None => is_error a
-                       end
-           | None => is_error a
-           end
-         | _ => match a with ARows _ _ | AHist _ _ => want_commit r v t a | _ => true end   (* refusing is fine; rows must be the right ones *)
-         end
-     if revdb_denotes r v then want_commit r v t a
-    else match (norm_base r (fst v), snd v) with
-         | (BBranch b, []) =>                         (* dirty branch: `db/branch` is the branch's working set *)
-           match branch_working r b with
-           | Some w => match assoc t (d_schema w) with
-                       | Some cols => ans_eqb a (ARows cols (rows_of t (d_data w)))
-                       | None => is_error a
-                       end
-           | None => is_error a
-           end
-         | _ => match a with ARows _ _ | AHist _ _ => want_commit r v t a | _ => true end   (* refusing is fine; rows must be the right ones *)
-         end
-:    if revdb_denotes r v then want_commit r v t a
-    else match (norm_base r (fst v), snd v) with
-         | (BBranch b, []) =>                         (* dirty branch: `db/branch` is the branch's working set *)
-           match branch_working r b with
-           | Some w => match assoc t (d_schema w) with
-                       | Some cols => ans_eqb a (ARows cols (rows_of t (d_data w)))
-                       | None => is_error a
-                       end
-           | None => is_error a
-           end
-         | _ => match a with ARows _ _ | AHist _ _ => want_commit r v t a | _ => true end   (* refusing is fine; rows must be the right ones *)
-         end
-     if revdb_denotes r v then want_commit r v t a
-    else match (norm_base r (fst v), snd v) with
-         | (BBranch b, []) =>                         (* dirty branch: `db/branch` is the branch's working set *)
-           match branch_working r b with
-           | Some w => match assoc t (d_schema w) with
-                       | Some cols => ans_eqb a (ARows cols (rows_of t (d_data w)))
-                       | None => is_error a
-                       end
-           | None => is_error a
-           end
-         | _ => match a with ARows _ _ | AHist _ _ => want_commit r v t a | _ => true end   (* refusing is fine; rows must be the right ones *)
-         end
-r    if revdb_denotes r v then want_commit r v t a
-    else match (norm_base r (fst v), snd v) with
-         | (BBranch b, []) =>                         (* dirty branch: `db/branch` is the branch's working set *)
-           match branch_working r b with
-           | Some w => match assoc t (d_schema w) with
-                       | Some cols => ans_eqb a (ARows cols (rows_of t (d_data w)))
-                       | None => is_error a
-                       end
-           | None => is_error a
-           end
-         | _ => match a with ARows _ _ | AHist _ _ => want_commit r v t a | _ => true end   (* refusing is fine; rows must be the right ones *)
-         end
-e    if revdb_denotes r v then want_commit r v t a
-    else match (norm_base r (fst v), snd v) with
-         | (BBranch b, []) =>                         (* dirty branch: `db/branch` is the branch's working set *)
-           match branch_working r b with
-           | Some w => match assoc t (d_schema w) with
-                       | Some cols => ans_eqb a (ARows cols (rows_of t (d_data w)))
-                       | None => is_error a
-                       end
-           | None => is_error a
-           end
-         | _ => match a with ARows _ _ | AHist _ _ => want_commit r v t a | _ => true end   (* refusing is fine; rows must be the right ones *)
-         end
-v    if revdb_denotes r v then want_commit r v t a
-    else match (norm_base r (fst v), snd v) with
-         | (BBranch b, []) =>                         (* dirty branch: `db/branch` is the branch's working set *)
-           match branch_working r b with
-           | Some w => match assoc t (d_schema w) with
-                       | Some cols => ans_eqb a (ARows cols (rows_of t (d_data w)))
-                       | None => is_error a
-                       end
-           | None => is_error a
-           end
-         | _ => match a with ARows _ _ | AHist _ _ => want_commit r v t a | _ => true end   (* refusing is fine; rows must be the right ones *)
-         end
-)    if revdb_denotes r v then want_commit r v t a
-    else match (norm_base r (fst v), snd v) with
-         | (BBranch b, []) =>                         (* dirty branch: `db/branch` is the branch's working set *)
-           match branch_working r b with
-           | Some w => match assoc t (d_schema w) with
-                       | Some cols => ans_eqb a (ARows cols (rows_of t (d_data w)))
-                       | None => is_error a
-                       end
-           | None => is_error a
-           end
-         | _ => match a with ARows _ _ | AHist _ _ => want_commit r v t a | _ => true end   (* refusing is fine; rows must be the right ones *)
-         end
-     if revdb_denotes r v then want_commit r v t a
-    else match (norm_base r (fst v), snd v) with
-         | (BBranch b, []) =>                         (* dirty branch: `db/branch` is the branch's working set *)
-           match branch_working r b with
-           | Some w => match assoc t (d_schema w) with
-                       | Some cols => ans_eqb a (ARows cols (rows_of t (d_data w)))
-                       | None => is_error a
-                       end
-           | None => is_error a
-           end
-         | _ => match a with ARows _ _ | AHist _ _ => want_commit r v t a | _ => true end   (* refusing is fine; rows must be the right ones *)
-         end
-(    if revdb_denotes r v then want_commit r v t a
-    else match (norm_base r (fst v), snd v) with
-         | (BBranch b, []) =>                         (* dirty branch: `db/branch` is the branch's working set *)
-           match branch_working r b with
-           | Some w => match assoc t (d_schema w) with
-                       | Some cols => ans_eqb a (ARows cols (rows_of t (d_data w)))
-                       | None => is_error a
-                       end
-           | None => is_error a
-           end
-         | _ => match a with ARows _ _ | AHist _ _ => want_commit r v t a | _ => true end   (* refusing is fine; rows must be the right ones *)
-         end
-t    if revdb_denotes r v then want_commit r v t a
-    else match (norm_base r (fst v), snd v) with
-         | (BBranch b, []) =>                         (* dirty branch: `db/branch` is the branch's working set *)
-           match branch_working r b with
-           | Some w => match assoc t (d_schema w) with
-                       | Some cols => ans_eqb a (ARows cols (rows_of t (d_data w)))
-                       | None => is_error a
-                       end
-           | None => is_error a
-           end
-         | _ => match a with ARows _ _ | AHist _ _ => want_commit r v t a | _ => true end   (* refusing is fine; rows must be the right ones *)
-         end
-     if revdb_denotes r v then want_commit r v t a
-    else match (norm_base r (fst v), snd v) with
-         | (BBranch b, []) =>                         (* dirty branch: `db/branch` is the branch's working set *)
-           match branch_working r b with
-           | Some w => match assoc t (d_schema w) with
-                       | Some cols => ans_eqb a (ARows cols (rows_of t (d_data w)))
-                       | None => is_error a
-                       end
-           | None => is_error a
-           end
-         | _ => match a with ARows _ _ | AHist _ _ => want_commit r v t a | _ => true end   (* refusing is fine; rows must be the right ones *)
-         end
-:    if revdb_denotes r v then want_commit r v t a
-    else match (norm_base r (fst v), snd v) with
-         | (BBranch b, []) =>                         (* dirty branch: `db/branch` is the branch's working set *)
-           match branch_working r b with
-           | Some w => match assoc t (d_schema w) with
-                       | Some cols => ans_eqb a (ARows cols (rows_of t (d_data w)))
-                       | None => is_error a
-                       end
-           | None => is_error a
-           end
-         | _ => match a with ARows _ _ | AHist _ _ => want_commit r v t a | _ => true end   (* refusing is fine; rows must be the right ones *)
-         end
-     if revdb_denotes r v then want_commit r v t a
-    else match (norm_base r (fst v), snd v) with
-         | (BBranch b, []) =>                         (* dirty branch: `db/branch` is the branch's working set *)
-           match branch_working r b with
-           | Some w => match assoc t (d_schema w) with
-                       | Some cols => ans_eqb a (ARows cols (rows_of t (d_data w)))
-                       | None => is_error a
-                       end
-           | None => is_error a
-           end
-         | _ => match a with ARows _ _ | AHist _ _ => want_commit r v t a | _ => true end   (* refusing is fine; rows must be the right ones *)
-         end
-N    if revdb_denotes r v then want_commit r v t a
-    else match (norm_base r (fst v), snd v) with
-         | (BBranch b, []) =>                         (* dirty branch: `db/branch` is the branch's working set *)
-           match branch_working r b with
-           | Some w => match assoc t (d_schema w) with
-                       | Some cols => ans_eqb a (ARows cols (rows_of t (d_data w)))
-                       | None => is_error a
-                       end
-           | None => is_error a
-           end
-         | _ => match a with ARows _ _ | AHist _ _ => want_commit r v t a | _ => true end   (* refusing is fine; rows must be the right ones *)
-         end
-)    if revdb_denotes r v then want_commit r v t a
-    else match (norm_base r (fst v), snd v) with
-         | (BBranch b, []) =>                         (* dirty branch: `db/branch` is the branch's working set *)
-           match branch_working r b with
-           | Some w => match assoc t (d_schema w) with
-                       | Some cols => ans_eqb a (ARows cols (rows_of t (d_data w)))
-                       | None => is_error a
-                       end
-           | None => is_error a
-           end
-         | _ => match a with ARows _ _ | AHist _ _ => want_commit r v t a | _ => true end   (* refusing is fine; rows must be the right ones *)
-         end
-     if revdb_denotes r v then want_commit r v t a
-    else match (norm_base r (fst v), snd v) with
-         | (BBranch b, []) =>                         (* dirty branch: `db/branch` is the branch's working set *)
-           match branch_working r b with
-           | Some w => match assoc t (d_schema w) with
-                       | Some cols => ans_eqb a (ARows cols (rows_of t (d_data w)))
-                       | None => is_error a
-                       end
-           | None => is_error a
-           end
-         | _ => match a with ARows _ _ | AHist _ _ => want_commit r v t a | _ => true end   (* refusing is fine; rows must be the right ones *)
-         end
-     if revdb_denotes r v then want_commit r v t a
-    else match (norm_base r (fst v), snd v) with
-         | (BBranch b, []) =>                         (* dirty branch: `db/branch` is the branch's working set *)
-           match branch_working r b with
-           | Some w => match assoc t (d_schema w) with
-                       | Some cols => ans_eqb a (ARows cols (rows_of t (d_data w)))
-                       | None => is_error a
-                       end
-           | None => is_error a
-           end
-         | _ => match a with ARows _ _ | AHist _ _ => want_commit r v t a | _ => true end   (* refusing is fine; rows must be the right ones *)
-         end
-     if revdb_denotes r v then want_commit r v t a
-    else match (norm_base r (fst v), snd v) with
-         | (BBranch b, []) =>                         (* dirty branch: `db/branch` is the branch's working set *)
-           match branch_working r b with
-           | Some w => match assoc t (d_schema w) with
-                       | Some cols => ans_eqb a (ARows cols (rows_of t (d_data w)))
-                       | None => is_error a
-                       end
-           | None => is_error a
-           end
-         | _ => match a with ARows _ _ | AHist _ _ => want_commit r v t a | _ => true end   (* refusing is fine; rows must be the right ones *)
-         end
-     if revdb_denotes r v then want_commit r v t a
-    else match (norm_base r (fst v), snd v) with
-         | (BBranch b, []) =>                         (* dirty branch: `db/branch` is the branch's working set *)
-           match branch_working r b with
-           | Some w => match assoc t (d_schema w) with
-                       | Some cols => ans_eqb a (ARows cols (rows_of t (d_data w)))
-                       | None => is_error a
-                       end
-           | None => is_error a
-           end
-         | _ => match a with ARows _ _ | AHist _ _ => want_commit r v t a | _ => true end   (* refusing is fine; rows must be the right ones *)
-         end
-(    if revdb_denotes r v then want_commit r v t a
-    else match (norm_base r (fst v), snd v) with
-         | (BBranch b, []) =>                         (* dirty branch: `db/branch` is the branch's working set *)
-           match branch_working r b with
-           | Some w => match assoc t (d_schema w) with
-                       | Some cols => ans_eqb a (ARows cols (rows_of t (d_data w)))
-                       | None => is_error a
-                       end
-           | None => is_error a
-           end
-         | _ => match a with ARows _ _ | AHist _ _ => want_commit r v t a | _ => true end   (* refusing is fine; rows must be the right ones *)
-         end
-*    if revdb_denotes r v then want_commit r v t a
-    else match (norm_base r (fst v), snd v) with
-         | (BBranch b, []) =>                         (* dirty branch: `db/branch` is the branch's working set *)
-           match branch_working r b with
-           | Some w => match assoc t (d_schema w) with
-                       | Some cols => ans_eqb a (ARows cols (rows_of t (d_data w)))
-                       | None => is_error a
-                       end
-           | None => is_error a
-           end
-         | _ => match a with ARows _ _ | AHist _ _ => want_commit r v t a | _ => true end   (* refusing is fine; rows must be the right ones *)
-         end
-     if revdb_denotes r v then want_commit r v t a
-    else match (norm_base r (fst v), snd v) with
-         | (BBranch b, []) =>                         (* dirty branch: `db/branch` is the branch's working set *)
-           match branch_working r b with
-           | Some w => match assoc t (d_schema w) with
-                       | Some cols => ans_eqb a (ARows cols (rows_of t (d_data w)))
-                       | None => is_error a
-                       end
-           | None => is_error a
-           end
-         | _ => match a with ARows _ _ | AHist _ _ => want_commit r v t a | _ => true end   (* refusing is fine; rows must be the right ones *)
-         end
-U    if revdb_denotes r v then want_commit r v t a
-    else match (norm_base r (fst v), snd v) with
-         | (BBranch b, []) =>                         (* dirty branch: `db/branch` is the branch's working set *)
-           match branch_working r b with
-           | Some w => match assoc t (d_schema w) with
-                       | Some cols => ans_eqb a (ARows cols (rows_of t (d_data w)))
-                       | None => is_error a
-                       end
-           | None => is_error a
-           end
-         | _ => match a with ARows _ _ | AHist _ _ => want_commit r v t a | _ => true end   (* refusing is fine; rows must be the right ones *)
-         end
-S    if revdb_denotes r v then want_commit r v t a
-    else match (norm_base r (fst v), snd v) with
-         | (BBranch b, []) =>                         (* dirty branch: `db/branch` is the branch's working set *)
-           match branch_working r b with
-           | Some w => match assoc t (d_schema w) with
-                       | Some cols => ans_eqb a (ARows cols (rows_of t (d_data w)))
-                       | None => is_error a
-                       end
-           | None => is_error a
-           end
-         | _ => match a with ARows _ _ | AHist _ _ => want_commit r v t a | _ => true end   (* refusing is fine; rows must be the right ones *)
-         end
-E    if revdb_denotes r v then want_commit r v t a
-    else match (norm_base r (fst v), snd v) with
-         | (BBranch b, []) =>                         (* dirty branch: `db/branch` is the branch's working set *)
-           match branch_working r b with
-           | Some w => match assoc t (d_schema w) with
-                       | Some cols => ans_eqb a (ARows cols (rows_of t (d_data w)))
-                       | None => is_error a
-                       end
-           | None => is_error a
-           end
-         | _ => match a with ARows _ _ | AHist _ _ => want_commit r v t a | _ => true end   (* refusing is fine; rows must be the right ones *)
-         end
-     if revdb_denotes r v then want_commit r v t a
-    else match (norm_base r (fst v), snd v) with
-         | (BBranch b, []) =>                         (* dirty branch: `db/branch` is the branch's working set *)
-           match branch_working r b with
-           | Some w => match assoc t (d_schema w) with
-                       | Some cols => ans_eqb a (ARows cols (rows_of t (d_data w)))
-                       | None => is_error a
-                       end
-           | None => is_error a
-           end
-         | _ => match a with ARows _ _ | AHist _ _ => want_commit r v t a | _ => true end   (* refusing is fine; rows must be the right ones *)
-         end
-`    if revdb_denotes r v then want_commit r v t a
-    else match (norm_base r (fst v), snd v) with
-         | (BBranch b, []) =>                         (* dirty branch: `db/branch` is the branch's working set *)
-           match branch_working r b with
-           | Some w => match assoc t (d_schema w) with
-                       | Some cols => ans_eqb a (ARows cols (rows_of t (d_data w)))
-                       | None => is_error a
-                       end
-           | None => is_error a
-           end
-         | _ => match a with ARows _ _ | AHist _ _ => want_commit r v t a | _ => true end   (* refusing is fine; rows must be the right ones *)
-         end
-d    if revdb_denotes r v then want_commit r v t a
-    else match (norm_base r (fst v), snd v) with
-         | (BBranch b, []) =>                         (* dirty branch: `db/branch` is the branch's working set *)
-           match branch_working r b with
-           | Some w => match assoc t (d_schema w) with
-                       | Some cols => ans_eqb a (ARows cols (rows_of t (d_data w)))
-                       | None => is_error a
-                       end
-           | None => is_error a
-           end
-         | _ => match a with ARows _ _ | AHist _ _ => want_commit r v t a | _ => true end   (* refusing is fine; rows must be the right ones *)
-         end
-b    if revdb_denotes r v then want_commit r v t a
-    else match (norm_base r (fst v), snd v) with
-         | (BBranch b, []) =>                         (* dirty branch: `db/branch` is the branch's working set *)
-           match branch_working r b with
-           | Some w => match assoc t (d_schema w) with
-                       | Some cols => ans_eqb a (ARows cols (rows_of t (d_data w)))
-                       | None => is_error a
-                       end
-           | None => is_error a
-           end
-         | _ => match a with ARows _ _ | AHist _ _ => want_commit r v t a | _ => true end   (* refusing is fine; rows must be the right ones *)
-         end
-/    if revdb_denotes r v then want_commit r v t a
-    else match (norm_base r (fst v), snd v) with
-         | (BBranch b, []) =>                         (* dirty branch: `db/branch` is the branch's working set *)
-           match branch_working r b with
-           | Some w => match assoc t (d_schema w) with
-                       | Some cols => ans_eqb a (ARows cols (rows_of t (d_data w)))
-                       | None => is_error a
-                       end
-           | None => is_error a
-           end
-         | _ => match a with ARows _ _ | AHist _ _ => want_commit r v t a | _ => true end   (* refusing is fine; rows must be the right ones *)
-         end
-<    if revdb_denotes r v then want_commit r v t a
-    else match (norm_base r (fst v), snd v) with
-         | (BBranch b, []) =>                         (* dirty branch: `db/branch` is the branch's working set *)
-           match branch_working r b with
-           | Some w => match assoc t (d_schema w) with
-                       | Some cols => ans_eqb a (ARows cols (rows_of t (d_data w)))
-                       | None => is_error a
-                       end
-           | None => is_error a
-           end
-         | _ => match a with ARows _ _ | AHist _ _ => want_commit r v t a | _ => true end   (* refusing is fine; rows must be the right ones *)
-         end
-r    if revdb_denotes r v then want_commit r v t a
-    else match (norm_base r (fst v), snd v) with
-         | (BBranch b, []) =>                         (* dirty branch: `db/branch` is the branch's working set *)
-           match branch_working r b with
-           | Some w => match assoc t (d_schema w) with
-                       | Some cols => ans_eqb a (ARows cols (rows_of t (d_data w)))
-                       | None => is_error a
-                       end
-           | None => is_error a
-           end
-         | _ => match a with ARows _ _ | AHist _ _ => want_commit r v t a | _ => true end   (* refusing is fine; rows must be the right ones *)
-         end
-e    if revdb_denotes r v then want_commit r v t a
-    else match (norm_base r (fst v), snd v) with
-         | (BBranch b, []) =>                         (* dirty branch: `db/branch` is the branch's working set *)
-           match branch_working r b with
-           | Some w => match assoc t (d_schema w) with
-                       | Some cols => ans_eqb a (ARows cols (rows_of t (d_data w)))
-                       | None => is_error a
-                       end
-           | None => is_error a
-           end
-         | _ => match a with ARows _ _ | AHist _ _ => want_commit r v t a | _ => true end   (* refusing is fine; rows must be the right ones *)
-         end
-v    if revdb_denotes r v then want_commit r v t a
-    else match (norm_base r (fst v), snd v) with
-         | (BBranch b, []) =>                         (* dirty branch: `db/branch` is the branch's working set *)
-           match branch_working r b with
-           | Some w => match assoc t (d_schema w) with
-                       | Some cols => ans_eqb a (ARows cols (rows_of t (d_data w)))
-                       | None => is_error a
-                       end
-           | None => is_error a
-           end
-         | _ => match a with ARows _ _ | AHist _ _ => want_commit r v t a | _ => true end   (* refusing is fine; rows must be the right ones *)
-         end
->    if revdb_denotes r v then want_commit r v t a
-    else match (norm_base r (fst v), snd v) with
-         | (BBranch b, []) =>                         (* dirty branch: `db/branch` is the branch's working set *)
-           match branch_working r b with
-           | Some w => match assoc t (d_schema w) with
-                       | Some cols => ans_eqb a (ARows cols (rows_of t (d_data w)))
-                       | None => is_error a
-                       end
-           | None => is_error a
-           end
-         | _ => match a with ARows _ _ | AHist _ _ => want_commit r v t a | _ => true end   (* refusing is fine; rows must be the right ones *)
-         end
-`    if revdb_denotes r v then want_commit r v t a
-    else match (norm_base r (fst v), snd v) with
-         | (BBranch b, []) =>                         (* dirty branch: `db/branch` is the branch's working set *)
-           match branch_working r b with
-           | Some w => match assoc t (d_schema w) with
-                       | Some cols => ans_eqb a (ARows cols (rows_of t (d_data w)))
-                       | None => is_error a
-                       end
-           | None => is_error a
-           end
-         | _ => match a with ARows _ _ | AHist _ _ => want_commit r v t a | _ => true end   (* refusing is fine; rows must be the right ones *)
-         end
-;    if revdb_denotes r v then want_commit r v t a
-    else match (norm_base r (fst v), snd v) with
-         | (BBranch b, []) =>                         (* dirty branch: `db/branch` is the branch's working set *)
-           match branch_working r b with
-           | Some w => match assoc t (d_schema w) with
-                       | Some cols => ans_eqb a (ARows cols (rows_of t (d_data w)))
-                       | None => is_error a
-                       end
-           | None => is_error a
-           end
-         | _ => match a with ARows _ _ | AHist _ _ => want_commit r v t a | _ => true end   (* refusing is fine; rows must be the right ones *)
-         end
-     if revdb_denotes r v then want_commit r v t a
-    else match (norm_base r (fst v), snd v) with
-         | (BBranch b, []) =>                         (* dirty branch: `db/branch` is the branch's working set *)
-           match branch_working r b with
-           | Some w => match assoc t (d_schema w) with
-                       | Some cols => ans_eqb a (ARows cols (rows_of t (d_data w)))
-                       | None => is_error a
-                       end
-           | None => is_error a
-           end
-         | _ => match a with ARows _ _ | AHist _ _ => want_commit r v t a | _ => true end   (* refusing is fine; rows must be the right ones *)
-         end
-S    if revdb_denotes r v then want_commit r v t a
-    else match (norm_base r (fst v), snd v) with
-         | (BBranch b, []) =>                         (* dirty branch: `db/branch` is the branch's working set *)
-           match branch_working r b with
-           | Some w => match assoc t (d_schema w) with
-                       | Some cols => ans_eqb a (ARows cols (rows_of t (d_data w)))
-                       | None => is_error a
-                       end
-           | None => is_error a
-           end
-         | _ => match a with ARows _ _ | AHist _ _ => want_commit r v t a | _ => true end   (* refusing is fine; rows must be the right ones *)
-         end
-E    if revdb_denotes r v then want_commit r v t a
-    else match (norm_base r (fst v), snd v) with
-         | (BBranch b, []) =>                         (* dirty branch: `db/branch` is the branch's working set *)
-           match branch_working r b with
-           | Some w => match assoc t (d_schema w) with
-                       | Some cols => ans_eqb a (ARows cols (rows_of t (d_data w)))
-                       | None => is_error a
-                       end
-           | None => is_error a
-           end
-         | _ => match a with ARows _ _ | AHist _ _ => want_commit r v t a | _ => true end   (* refusing is fine; rows must be the right ones *)
-         end
-L    if revdb_denotes r v then want_commit r v t a
-    else match (norm_base r (fst v), snd v) with
-         | (BBranch b, []) =>                         (* dirty branch: `db/branch` is the branch's working set *)
-           match branch_working r b with
-           | Some w => match assoc t (d_schema w) with
-                       | Some cols => ans_eqb a (ARows cols (rows_of t (d_data w)))
-                       | None => is_error a
-                       end
-           | None => is_error a
-           end
-         | _ => match a with ARows _ _ | AHist _ _ => want_commit r v t a | _ => true end   (* refusing is fine; rows must be the right ones *)
-         end
-E    if revdb_denotes r v then want_commit r v t a
-    else match (norm_base r (fst v), snd v) with
-         | (BBranch b, []) =>                         (* dirty branch: `db/branch` is the branch's working set *)
-           match branch_working r b with
-           | Some w => match assoc t (d_schema w) with
-                       | Some cols => ans_eqb a (ARows cols (rows_of t (d_data w)))
-                       | None => is_error a
-                       end
-           | None => is_error a
-           end
-         | _ => match a with ARows _ _ | AHist _ _ => want_commit r v t a | _ => true end   (* refusing is fine; rows must be the right ones *)
-         end
-C    if revdb_denotes r v then want_commit r v t a
-    else match (norm_base r (fst v), snd v) with
-         | (BBranch b, []) =>                         (* dirty branch: `db/branch` is the branch's working set *)
-           match branch_working r b with
-           | Some w => match assoc t (d_schema w) with
-                       | Some cols => ans_eqb a (ARows cols (rows_of t (d_data w)))
-                       | None => is_error a
-                       end
-           | None => is_error a
-           end
-         | _ => match a with ARows _ _ | AHist _ _ => want_commit r v t a | _ => true end   (* refusing is fine; rows must be the right ones *)
-         end
-T    if revdb_denotes r v then want_commit r v t a
-    else match (norm_base r (fst v), snd v) with
-         | (BBranch b, []) =>                         (* dirty branch: `db/branch` is the branch's working set *)
-           match branch_working r b with
-           | Some w => match assoc t (d_schema w) with
-                       | Some cols => ans_eqb a (ARows cols (rows_of t (d_data w)))
-                       | None => is_error a
-                       end
-           | None => is_error a
-           end
-         | _ => match a with ARows _ _ | AHist _ _ => want_commit r v t a | _ => true end   (* refusing is fine; rows must be the right ones *)
-         end
-     if revdb_denotes r v then want_commit r v t a
-    else match (norm_base r (fst v), snd v) with
-         | (BBranch b, []) =>                         (* dirty branch: `db/branch` is the branch's working set *)
-           match branch_working r b with
-           | Some w => match assoc t (d_schema w) with
-                       | Some cols => ans_eqb a (ARows cols (rows_of t (d_data w)))
-                       | None => is_error a
-                       end
-           | None => is_error a
-           end
-         | _ => match a with ARows _ _ | AHist _ _ => want_commit r v t a | _ => true end   (* refusing is fine; rows must be the right ones *)
-         end
-*    if revdb_denotes r v then want_commit r v t a
-    else match (norm_base r (fst v), snd v) with
-         | (BBranch b, []) =>                         (* dirty branch: `db/branch` is the branch's working set *)
-           match branch_working r b with
-           | Some w => match assoc t (d_schema w) with
-                       | Some cols => ans_eqb a (ARows cols (rows_of t (d_data w)))
-                       | None => is_error a
-                       end
-           | None => is_error a
-           end
-         | _ => match a with ARows _ _ | AHist _ _ => want_commit r v t a | _ => true end   (* refusing is fine; rows must be the right ones *)
-         end
-     if revdb_denotes r v then want_commit r v t a
-    else match (norm_base r (fst v), snd v) with
-         | (BBranch b, []) =>                         (* dirty branch: `db/branch` is the branch's working set *)
-           match branch_working r b with
-           | Some w => match assoc t (d_schema w) with
-                       | Some cols => ans_eqb a (ARows cols (rows_of t (d_data w)))
-                       | None => is_error a
-                       end
-           | None => is_error a
-           end
-         | _ => match a with ARows _ _ | AHist _ _ => want_commit r v t a | _ => true end   (* refusing is fine; rows must be the right ones *)
-         end
-F    if revdb_denotes r v then want_commit r v t a
-    else match (norm_base r (fst v), snd v) with
-         | (BBranch b, []) =>                         (* dirty branch: `db/branch` is the branch's working set *)
-           match branch_working r b with
-           | Some w => match assoc t (d_schema w) with
-                       | Some cols => ans_eqb a (ARows cols (rows_of t (d_data w)))
-                       | None => is_error a
-                       end
-           | None => is_error a
-           end
-         | _ => match a with ARows _ _ | AHist _ _ => want_commit r v t a | _ => true end   (* refusing is fine; rows must be the right ones *)
-         end
-R    if revdb_denotes r v then want_commit r v t a
-    else match (norm_base r (fst v), snd v) with
-         | (BBranch b, []) =>                         (* dirty branch: `db/branch` is the branch's working set *)
-           match branch_working r b with
-           | Some w => match assoc t (d_schema w) with
-                       | Some cols => ans_eqb a (ARows cols (rows_of t (d_data w)))
-                       | None => is_error a
-                       end
-           | None => is_error a
-           end
-         | _ => match a with ARows _ _ | AHist _ _ => want_commit r v t a | _ => true end   (* refusing is fine; rows must be the right ones *)
-         end
-O    if revdb_denotes r v then want_commit r v t a
-    else match (norm_base r (fst v), snd v) with
-         | (BBranch b, []) =>                         (* dirty branch: `db/branch` is the branch's working set *)
-           match branch_working r b with
-           | Some w => match assoc t (d_schema w) with
-                       | Some cols => ans_eqb a (ARows cols (rows_of t (d_data w)))
-                       | None => is_error a
-                       end
-           | None => is_error a
-           end
-         | _ => match a with ARows _ _ | AHist _ _ => want_commit r v t a | _ => true end   (* refusing is fine; rows must be the right ones *)
-         end
-M    if revdb_denotes r v then want_commit r v t a
-    else match (norm_base r (fst v), snd v) with
-         | (BBranch b, []) =>                         (* dirty branch: `db/branch` is the branch's working set *)
-           match branch_working r b with
-           | Some w => match assoc t (d_schema w) with
-                       | Some cols => ans_eqb a (ARows cols (rows_of t (d_data w)))
-                       | None => is_error a
-                       end
-           | None => is_error a
-           end
-         | _ => match a with ARows _ _ | AHist _ _ => want_commit r v t a | _ => true end   (* refusing is fine; rows must be the right ones *)
-         end
-     if revdb_denotes r v then want_commit r v t a
-    else match (norm_base r (fst v), snd v) with
-         | (BBranch b, []) =>                         (* dirty branch: `db/branch` is the branch's working set *)
-           match branch_working r b with
-           | Some w => match assoc t (d_schema w) with
-                       | Some cols => ans_eqb a (ARows cols (rows_of t (d_data w)))
-                       | None => is_error a
-                       end
-           | None => is_error a
-           end
-         | _ => match a with ARows _ _ | AHist _ _ => want_commit r v t a | _ => true end   (* refusing is fine; rows must be the right ones *)
-         end
-t    if revdb_denotes r v then want_commit r v t a
-    else match (norm_base r (fst v), snd v) with
-         | (BBranch b, []) =>                         (* dirty branch: `db/branch` is the branch's working set *)
-           match branch_working r b with
-           | Some w => match assoc t (d_schema w) with
-                       | Some cols => ans_eqb a (ARows cols (rows_of t (d_data w)))
-                       | None => is_error a
-                       end
-           | None => is_error a
-           end
-         | _ => match a with ARows _ _ | AHist _ _ => want_commit r v t a | _ => true end   (* refusing is fine; rows must be the right ones *)
-         end
-     if revdb_denotes r v then want_commit r v t a
-    else match (norm_base r (fst v), snd v) with
-         | (BBranch b, []) =>                         (* dirty branch: `db/branch` is the branch's working set *)
-           match branch_working r b with
-           | Some w => match assoc t (d_schema w) with
-                       | Some cols => ans_eqb a (ARows cols (rows_of t (d_data w)))
-                       | None => is_error a
-                       end
-           | None => is_error a
-           end
-         | _ => match a with ARows _ _ | AHist _ _ => want_commit r v t a | _ => true end   (* refusing is fine; rows must be the right ones *)
-         end
-*    if revdb_denotes r v then want_commit r v t a
-    else match (norm_base r (fst v), snd v) with
-         | (BBranch b, []) =>                         (* dirty branch: `db/branch` is the branch's working set *)
-           match branch_working r b with
-           | Some w => match assoc t (d_schema w) with
-                       | Some cols => ans_eqb a (ARows cols (rows_of t (d_data w)))
-                       | None => is_error a
-                       end
-           | None => is_error a
-           end
-         | _ => match a with ARows _ _ | AHist _ _ => want_commit r v t a | _ => true end   (* refusing is fine; rows must be the right ones *)
-         end
-)    if revdb_denotes r v then want_commit r v t a
-    else match (norm_base r (fst v), snd v) with
-         | (BBranch b, []) =>                         (* dirty branch: `db/branch` is the branch's working set *)
-           match branch_working r b with
-           | Some w => match assoc t (d_schema w) with
-                       | Some cols => ans_eqb a (ARows cols (rows_of t (d_data w)))
-                       | None => is_error a
-                       end
-           | None => is_error a
-           end
-         | _ => match a with ARows _ _ | AHist _ _ => want_commit r v t a | _ => true end   (* refusing is fine; rows must be the right ones *)
-         end
-
-    if revdb_denotes r v then want_commit r v t a
-    else match (norm_base r (fst v), snd v) with
-         | (BBranch b, []) =>                         (* dirty branch: `db/branch` is the branch's working set *)
-           match branch_working r b with
-           | Some w => match assoc t (d_schema w) with
-                       | Some cols => ans_eqb a (ARows cols (rows_of t (d_data w)))
-                       | None => is_error a
-                       end
-           | None => is_error a
-           end
-         | _ => match a with ARows _ _ | AHist _ _ => want_commit r v t a | _ => true end   (* refusing is fine; rows must be the right ones *)
-         end
-|    if revdb_denotes r v then want_commit r v t a
-    else match (norm_base r (fst v), snd v) with
-         | (BBranch b, []) =>                         (* dirty branch: `db/branch` is the branch's working set *)
-           match branch_working r b with
-           | Some w => match assoc t (d_schema w) with
-                       | Some cols => ans_eqb a (ARows cols (rows_of t (d_data w)))
-                       | None => is_error a
-                       end
-           | None => is_error a
-           end
-         | _ => match a with ARows _ _ | AHist _ _ => want_commit r v t a | _ => true end   (* refusing is fine; rows must be the right ones *)
-         end
-     if revdb_denotes r v then want_commit r v t a
-    else match (norm_base r (fst v), snd v) with
-         | (BBranch b, []) =>                         (* dirty branch: `db/branch` is the branch's working set *)
-           match branch_working r b with
-           | Some w => match assoc t (d_schema w) with
-                       | Some cols => ans_eqb a (ARows cols (rows_of t (d_data w)))
-                       | None => is_error a
-                       end
-           | None => is_error a
-           end
-         | _ => match a with ARows _ _ | AHist _ _ => want_commit r v t a | _ => true end   (* refusing is fine; rows must be the right ones *)
-         end
-Q    if revdb_denotes r v then want_commit r v t a
-    else match (norm_base r (fst v), snd v) with
-         | (BBranch b, []) =>                         (* dirty branch: `db/branch` is the branch's working set *)
-           match branch_working r b with
-           | Some w => match assoc t (d_schema w) with
-                       | Some cols => ans_eqb a (ARows cols (rows_of t (d_data w)))
-                       | None => is_error a
-                       end
-           | None => is_error a
-           end
-         | _ => match a with ARows _ _ | AHist _ _ => want_commit r v t a | _ => true end   (* refusing is fine; rows must be the right ones *)
-         end
-H    if revdb_denotes r v then want_commit r v t a
-    else match (norm_base r (fst v), snd v) with
-         | (BBranch b, []) =>                         (* dirty branch: `db/branch` is the branch's working set *)
-           match branch_working r b with
-           | Some w => match assoc t (d_schema w) with
-                       | Some cols => ans_eqb a (ARows cols (rows_of t (d_data w)))
-                       | None => is_error a
-                       end
-           | None => is_error a
-           end
-         | _ => match a with ARows _ _ | AHist _ _ => want_commit r v t a | _ => true end   (* refusing is fine; rows must be the right ones *)
-         end
-i    if revdb_denotes r v then want_commit r v t a
-    else match (norm_base r (fst v), snd v) with
-         | (BBranch b, []) =>                         (* dirty branch: `db/branch` is the branch's working set *)
-           match branch_working r b with
-           | Some w => match assoc t (d_schema w) with
-                       | Some cols => ans_eqb a (ARows cols (rows_of t (d_data w)))
-                       | None => is_error a
-                       end
-           | None => is_error a
-           end
-         | _ => match a with ARows _ _ | AHist _ _ => want_commit r v t a | _ => true end   (* refusing is fine; rows must be the right ones *)
-         end
-s    if revdb_denotes r v then want_commit r v t a
-    else match (norm_base r (fst v), snd v) with
-         | (BBranch b, []) =>                         (* dirty branch: `db/branch` is the branch's working set *)
-           match branch_working r b with
-           | Some w => match assoc t (d_schema w) with
-                       | Some cols => ans_eqb a (ARows cols (rows_of t (d_data w)))
-                       | None => is_error a
-                       end
-           | None => is_error a
-           end
-         | _ => match a with ARows _ _ | AHist _ _ => want_commit r v t a | _ => true end   (* refusing is fine; rows must be the right ones *)
-         end
-t    if revdb_denotes r v then want_commit r v t a
-    else match (norm_base r (fst v), snd v) with
-         | (BBranch b, []) =>                         (* dirty branch: `db/branch` is the branch's working set *)
-           match branch_working r b with
-           | Some w => match assoc t (d_schema w) with
-                       | Some cols => ans_eqb a (ARows cols (rows_of t (d_data w)))
-                       | None => is_error a
-                       end
-           | None => is_error a
-           end
-         | _ => match a with ARows _ _ | AHist _ _ => want_commit r v t a | _ => true end   (* refusing is fine; rows must be the right ones *)
-         end
-A    if revdb_denotes r v then want_commit r v t a
-    else match (norm_base r (fst v), snd v) with
-         | (BBranch b, []) =>                         (* dirty branch: `db/branch` is the branch's working set *)
-           match branch_working r b with
-           | Some w => match assoc t (d_schema w) with
-                       | Some cols => ans_eqb a (ARows cols (rows_of t (d_data w)))
-                       | None => is_error a
-                       end
-           | None => is_error a
-           end
-         | _ => match a with ARows _ _ | AHist _ _ => want_commit r v t a | _ => true end   (* refusing is fine; rows must be the right ones *)
-         end
-t    if revdb_denotes r v then want_commit r v t a
-    else match (norm_base r (fst v), snd v) with
-         | (BBranch b, []) =>                         (* dirty branch: `db/branch` is the branch's working set *)
-           match branch_working r b with
-           | Some w => match assoc t (d_schema w) with
-                       | Some cols => ans_eqb a (ARows cols (rows_of t (d_data w)))
-                       | None => is_error a
-                       end
-           | None => is_error a
-           end
-         | _ => match a with ARows _ _ | AHist _ _ => want_commit r v t a | _ => true end   (* refusing is fine; rows must be the right ones *)
-         end
-     if revdb_denotes r v then want_commit r v t a
-    else match (norm_base r (fst v), snd v) with
-         | (BBranch b, []) =>                         (* dirty branch: `db/branch` is the branch's working set *)
-           match branch_working r b with
-           | Some w => match assoc t (d_schema w) with
-                       | Some cols => ans_eqb a (ARows cols (rows_of t (d_data w)))
-                       | None => is_error a
-                       end
-           | None => is_error a
-           end
-         | _ => match a with ARows _ _ | AHist _ _ => want_commit r v t a | _ => true end   (* refusing is fine; rows must be the right ones *)
-         end
-(    if revdb_denotes r v then want_commit r v t a
-    else match (norm_base r (fst v), snd v) with
-         | (BBranch b, []) =>                         (* dirty branch: `db/branch` is the branch's working set *)
-           match branch_working r b with
-           | Some w => match assoc t (d_schema w) with
-                       | Some cols => ans_eqb a (ARows cols (rows_of t (d_data w)))
-                       | None => is_error a
-                       end
-           | None => is_error a
-           end
-         | _ => match a with ARows _ _ | AHist _ _ => want_commit r v t a | _ => true end   (* refusing is fine; rows must be the right ones *)
-         end
-c    if revdb_denotes r v then want_commit r v t a
-    else match (norm_base r (fst v), snd v) with
-         | (BBranch b, []) =>                         (* dirty branch: `db/branch` is the branch's working set *)
-           match branch_working r b with
-           | Some w => match assoc t (d_schema w) with
-                       | Some cols => ans_eqb a (ARows cols (rows_of t (d_data w)))
-                       | None => is_error a
-                       end
-           | None => is_error a
-           end
-         | _ => match a with ARows _ _ | AHist _ _ => want_commit r v t a | _ => true end   (* refusing is fine; rows must be the right ones *)
-         end
-     if revdb_denotes r v then want_commit r v t a
-    else match (norm_base r (fst v), snd v) with
-         | (BBranch b, []) =>                         (* dirty branch: `db/branch` is the branch's working set *)
-           match branch_working r b with
-           | Some w => match assoc t (d_schema w) with
-                       | Some cols => ans_eqb a (ARows cols (rows_of t (d_data w)))
-                       | None => is_error a
-                       end
-           | None => is_error a
-           end
-         | _ => match a with ARows _ _ | AHist _ _ => want_commit r v t a | _ => true end   (* refusing is fine; rows must be the right ones *)
-         end
-:    if revdb_denotes r v then want_commit r v t a
-    else match (norm_base r (fst v), snd v) with
-         | (BBranch b, []) =>                         (* dirty branch: `db/branch` is the branch's working set *)
-           match branch_working r b with
-           | Some w => match assoc t (d_schema w) with
-                       | Some cols => ans_eqb a (ARows cols (rows_of t (d_data w)))
-                       | None => is_error a
-                       end
-           | None => is_error a
-           end
-         | _ => match a with ARows _ _ | AHist _ _ => want_commit r v t a | _ => true end   (* refusing is fine; rows must be the right ones *)
-         end
-     if revdb_denotes r v then want_commit r v t a
-    else match (norm_base r (fst v), snd v) with
-         | (BBranch b, []) =>                         (* dirty branch: `db/branch` is the branch's working set *)
-           match branch_working r b with
-           | Some w => match assoc t (d_schema w) with
-                       | Some cols => ans_eqb a (ARows cols (rows_of t (d_data w)))
-                       | None => is_error a
-                       end
-           | None => is_error a
-           end
-         | _ => match a with ARows _ _ | AHist _ _ => want_commit r v t a | _ => true end   (* refusing is fine; rows must be the right ones *)
-         end
-N    if revdb_denotes r v then want_commit r v t a
-    else match (norm_base r (fst v), snd v) with
-         | (BBranch b, []) =>                         (* dirty branch: `db/branch` is the branch's working set *)
-           match branch_working r b with
-           | Some w => match assoc t (d_schema w) with
-                       | Some cols => ans_eqb a (ARows cols (rows_of t (d_data w)))
-                       | None => is_error a
-                       end
-           | None => is_error a
-           end
-         | _ => match a with ARows _ _ | AHist _ _ => want_commit r v t a | _ => true end   (* refusing is fine; rows must be the right ones *)
-         end
-)    if revdb_denotes r v then want_commit r v t a
-    else match (norm_base r (fst v), snd v) with
-         | (BBranch b, []) =>                         (* dirty branch: `db/branch` is the branch's working set *)
-           match branch_working r b with
-           | Some w => match assoc t (d_schema w) with
-                       | Some cols => ans_eqb a (ARows cols (rows_of t (d_data w)))
-                       | None => is_error a
-                       end
-           | None => is_error a
-           end
-         | _ => match a with ARows _ _ | AHist _ _ => want_commit r v t a | _ => true end   (* refusing is fine; rows must be the right ones *)
-         end
-     if revdb_denotes r v then want_commit r v t a
-    else match (norm_base r (fst v), snd v) with
-         | (BBranch b, []) =>                         (* dirty branch: `db/branch` is the branch's working set *)
-           match branch_working r b with
-           | Some w => match assoc t (d_schema w) with
-                       | Some cols => ans_eqb a (ARows cols (rows_of t (d_data w)))
-                       | None => is_error a
-                       end
-           | None => is_error a
-           end
-         | _ => match a with ARows _ _ | AHist _ _ => want_commit r v t a | _ => true end   (* refusing is fine; rows must be the right ones *)
-         end
-(    if revdb_denotes r v then want_commit r v t a
-    else match (norm_base r (fst v), snd v) with
-         | (BBranch b, []) =>                         (* dirty branch: `db/branch` is the branch's working set *)
-           match branch_working r b with
-           | Some w => match assoc t (d_schema w) with
-                       | Some cols => ans_eqb a (ARows cols (rows_of t (d_data w)))
-                       | None => is_error a
-                       end
-           | None => is_error a
-           end
-         | _ => match a with ARows _ _ | AHist _ _ => want_commit r v t a | _ => true end   (* refusing is fine; rows must be the right ones *)
-         end
-t    if revdb_denotes r v then want_commit r v t a
-    else match (norm_base r (fst v), snd v) with
-         | (BBranch b, []) =>                         (* dirty branch: `db/branch` is the branch's working set *)
-           match branch_working r b with
-           | Some w => match assoc t (d_schema w) with
-                       | Some cols => ans_eqb a (ARows cols (rows_of t (d_data w)))
-                       | None => is_error a
-                       end
-           | None => is_error a
-           end
-         | _ => match a with ARows _ _ | AHist _ _ => want_commit r v t a | _ => true end   (* refusing is fine; rows must be the right ones *)
-         end
-     if revdb_denotes r v then want_commit r v t a
-    else match (norm_base r (fst v), snd v) with
-         | (BBranch b, []) =>                         (* dirty branch: `db/branch` is the branch's working set *)
-           match branch_working r b with
-           | Some w => match assoc t (d_schema w) with
-                       | Some cols => ans_eqb a (ARows cols (rows_of t (d_data w)))
-                       | None => is_error a
-                       end
-           | None => is_error a
-           end
-         | _ => match a with ARows _ _ | AHist _ _ => want_commit r v t a | _ => true end   (* refusing is fine; rows must be the right ones *)
-         end
-:    if revdb_denotes r v then want_commit r v t a
-    else match (norm_base r (fst v), snd v) with
-         | (BBranch b, []) =>                         (* dirty branch: `db/branch` is the branch's working set *)
-           match branch_working r b with
-           | Some w => match assoc t (d_schema w) with
-                       | Some cols => ans_eqb a (ARows cols (rows_of t (d_data w)))
-                       | None => is_error a
-                       end
-           | None => is_error a
-           end
-         | _ => match a with ARows _ _ | AHist _ _ => want_commit r v t a | _ => true end   (* refusing is fine; rows must be the right ones *)
-         end
-     if revdb_denotes r v then want_commit r v t a
-    else match (norm_base r (fst v), snd v) with
-         | (BBranch b, []) =>                         (* dirty branch: `db/branch` is the branch's working set *)
-           match branch_working r b with
-           | Some w => match assoc t (d_schema w) with
-                       | Some cols => ans_eqb a (ARows cols (rows_of t (d_data w)))
-                       | None => is_error a
-                       end
-           | None => is_error a
-           end
-         | _ => match a with ARows _ _ | AHist _ _ => want_commit r v t a | _ => true end   (* refusing is fine; rows must be the right ones *)
-         end
-N    if revdb_denotes r v then want_commit r v t a
-    else match (norm_base r (fst v), snd v) with
-         | (BBranch b, []) =>                         (* dirty branch: `db/branch` is the branch's working set *)
-           match branch_working r b with
-           | Some w => match assoc t (d_schema w) with
-                       | Some cols => ans_eqb a (ARows cols (rows_of t (d_data w)))
-                       | None => is_error a
-                       end
-           | None => is_error a
-           end
-         | _ => match a with ARows _ _ | AHist _ _ => want_commit r v t a | _ => true end   (* refusing is fine; rows must be the right ones *)
-         end
-)    if revdb_denotes r v then want_commit r v t a
-    else match (norm_base r (fst v), snd v) with
-         | (BBranch b, []) =>                         (* dirty branch: `db/branch` is the branch's working set *)
-           match branch_working r b with
-           | Some w => match assoc t (d_schema w) with
-                       | Some cols => ans_eqb a (ARows cols (rows_of t (d_data w)))
-                       | None => is_error a
-                       end
-           | None => is_error a
-           end
-         | _ => match a with ARows _ _ | AHist _ _ => want_commit r v t a | _ => true end   (* refusing is fine; rows must be the right ones *)
-         end
-     if revdb_denotes r v then want_commit r v t a
-    else match (norm_base r (fst v), snd v) with
-         | (BBranch b, []) =>                         (* dirty branch: `db/branch` is the branch's working set *)
-           match branch_working r b with
-           | Some w => match assoc t (d_schema w) with
-                       | Some cols => ans_eqb a (ARows cols (rows_of t (d_data w)))
-                       | None => is_error a
-                       end
-           | None => is_error a
-           end
-         | _ => match a with ARows _ _ | AHist _ _ => want_commit r v t a | _ => true end   (* refusing is fine; rows must be the right ones *)
-         end
-     if revdb_denotes r v then want_commit r v t a
-    else match (norm_base r (fst v), snd v) with
-         | (BBranch b, []) =>                         (* dirty branch: `db/branch` is the branch's working set *)
-           match branch_working r b with
-           | Some w => match assoc t (d_schema w) with
-                       | Some cols => ans_eqb a (ARows cols (rows_of t (d_data w)))
-                       | None => is_error a
-                       end
-           | None => is_error a
-           end
-         | _ => match a with ARows _ _ | AHist _ _ => want_commit r v t a | _ => true end   (* refusing is fine; rows must be the right ones *)
-         end
-     if revdb_denotes r v then want_commit r v t a
-    else match (norm_base r (fst v), snd v) with
-         | (BBranch b, []) =>                         (* dirty branch: `db/branch` is the branch's working set *)
-           match branch_working r b with
-           | Some w => match assoc t (d_schema w) with
-                       | Some cols => ans_eqb a (ARows cols (rows_of t (d_data w)))
-                       | None => is_error a
-                       end
-           | None => is_error a
-           end
-         | _ => match a with ARows _ _ | AHist _ _ => want_commit r v t a | _ => true end   (* refusing is fine; rows must be the right ones *)
-         end
-     if revdb_denotes r v then want_commit r v t a
-    else match (norm_base r (fst v), snd v) with
-         | (BBranch b, []) =>                         (* dirty branch: `db/branch` is the branch's working set *)
-           match branch_working r b with
-           | Some w => match assoc t (d_schema w) with
-                       | Some cols => ans_eqb a (ARows cols (rows_of t (d_data w)))
-                       | None => is_error a
-                       end
-           | None => is_error a
-           end
-         | _ => match a with ARows _ _ | AHist _ _ => want_commit r v t a | _ => true end   (* refusing is fine; rows must be the right ones *)
-         end
-     if revdb_denotes r v then want_commit r v t a
-    else match (norm_base r (fst v), snd v) with
-         | (BBranch b, []) =>                         (* dirty branch: `db/branch` is the branch's working set *)
-           match branch_working r b with
-           | Some w => match assoc t (d_schema w) with
-                       | Some cols => ans_eqb a (ARows cols (rows_of t (d_data w)))
-                       | None => is_error a
-                       end
-           | None => is_error a
-           end
-         | _ => match a with ARows _ _ | AHist _ _ => want_commit r v t a | _ => true end   (* refusing is fine; rows must be the right ones *)
-         end
-     if revdb_denotes r v then want_commit r v t a
-    else match (norm_base r (fst v), snd v) with
-         | (BBranch b, []) =>                         (* dirty branch: `db/branch` is the branch's working set *)
-           match branch_working r b with
-           | Some w => match assoc t (d_schema w) with
-                       | Some cols => ans_eqb a (ARows cols (rows_of t (d_data w)))
-                       | None => is_error a
-                       end
-           | None => is_error a
-           end
-         | _ => match a with ARows _ _ | AHist _ _ => want_commit r v t a | _ => true end   (* refusing is fine; rows must be the right ones *)
-         end
-     if revdb_denotes r v then want_commit r v t a
-    else match (norm_base r (fst v), snd v) with
-         | (BBranch b, []) =>                         (* dirty branch: `db/branch` is the branch's working set *)
-           match branch_working r b with
-           | Some w => match assoc t (d_schema w) with
-                       | Some cols => ans_eqb a (ARows cols (rows_of t (d_data w)))
-                       | None => is_error a
-                       end
-           | None => is_error a
-           end
-         | _ => match a with ARows _ _ | AHist _ _ => want_commit r v t a | _ => true end   (* refusing is fine; rows must be the right ones *)
-         end
-     if revdb_denotes r v then want_commit r v t a
-    else match (norm_base r (fst v), snd v) with
-         | (BBranch b, []) =>                         (* dirty branch: `db/branch` is the branch's working set *)
-           match branch_working r b with
-           | Some w => match assoc t (d_schema w) with
-                       | Some cols => ans_eqb a (ARows cols (rows_of t (d_data w)))
-                       | None => is_error a
-                       end
-           | None => is_error a
-           end
-         | _ => match a with ARows _ _ | AHist _ _ => want_commit r v t a | _ => true end   (* refusing is fine; rows must be the right ones *)
-         end
-(    if revdb_denotes r v then want_commit r v t a
-    else match (norm_base r (fst v), snd v) with
-         | (BBranch b, []) =>                         (* dirty branch: `db/branch` is the branch's working set *)
-           match branch_working r b with
-           | Some w => match assoc t (d_schema w) with
-                       | Some cols => ans_eqb a (ARows cols (rows_of t (d_data w)))
-                       | None => is_error a
-                       end
-           | None => is_error a
-           end
-         | _ => match a with ARows _ _ | AHist _ _ => want_commit r v t a | _ => true end   (* refusing is fine; rows must be the right ones *)
-         end
-*    if revdb_denotes r v then want_commit r v t a
-    else match (norm_base r (fst v), snd v) with
-         | (BBranch b, []) =>                         (* dirty branch: `db/branch` is the branch's working set *)
-           match branch_working r b with
-           | Some w => match assoc t (d_schema w) with
-                       | Some cols => ans_eqb a (ARows cols (rows_of t (d_data w)))
-                       | None => is_error a
-                       end
-           | None => is_error a
-           end
-         | _ => match a with ARows _ _ | AHist _ _ => want_commit r v t a | _ => true end   (* refusing is fine; rows must be the right ones *)
-         end
-     if revdb_denotes r v then want_commit r v t a
-    else match (norm_base r (fst v), snd v) with
-         | (BBranch b, []) =>                         (* dirty branch: `db/branch` is the branch's working set *)
-           match branch_working r b with
-           | Some w => match assoc t (d_schema w) with
-                       | Some cols => ans_eqb a (ARows cols (rows_of t (d_data w)))
-                       | None => is_error a
-                       end
-           | None => is_error a
-           end
-         | _ => match a with ARows _ _ | AHist _ _ => want_commit r v t a | _ => true end   (* refusing is fine; rows must be the right ones *)
-         end
-S    if revdb_denotes r v then want_commit r v t a
-    else match (norm_base r (fst v), snd v) with
-         | (BBranch b, []) =>                         (* dirty branch: `db/branch` is the branch's working set *)
-           match branch_working r b with
-           | Some w => match assoc t (d_schema w) with
-                       | Some cols => ans_eqb a (ARows cols (rows_of t (d_data w)))
-                       | None => is_error a
-                       end
-           | None => is_error a
-           end
-         | _ => match a with ARows _ _ | AHist _ _ => want_commit r v t a | _ => true end   (* refusing is fine; rows must be the right ones *)
-         end
-E    if revdb_denotes r v then want_commit r v t a
-    else match (norm_base r (fst v), snd v) with
-         | (BBranch b, []) =>                         (* dirty branch: `db/branch` is the branch's working set *)
-           match branch_working r b with
-           | Some w => match assoc t (d_schema w) with
-                       | Some cols => ans_eqb a (ARows cols (rows_of t (d_data w)))
-                       | None => is_error a
-                       end
-           | None => is_error a
-           end
-         | _ => match a with ARows _ _ | AHist _ _ => want_commit r v t a | _ => true end   (* refusing is fine; rows must be the right ones *)
-         end
-L    if revdb_denotes r v then want_commit r v t a
-    else match (norm_base r (fst v), snd v) with
-         | (BBranch b, []) =>                         (* dirty branch: `db/branch` is the branch's working set *)
-           match branch_working r b with
-           | Some w => match assoc t (d_schema w) with
-                       | Some cols => ans_eqb a (ARows cols (rows_of t (d_data w)))
-                       | None => is_error a
-                       end
-           | None => is_error a
-           end
-         | _ => match a with ARows _ _ | AHist _ _ => want_commit r v t a | _ => true end   (* refusing is fine; rows must be the right ones *)
-         end
-E    if revdb_denotes r v then want_commit r v t a
-    else match (norm_base r (fst v), snd v) with
-         | (BBranch b, []) =>                         (* dirty branch: `db/branch` is the branch's working set *)
-           match branch_working r b with
-           | Some w => match assoc t (d_schema w) with
-                       | Some cols => ans_eqb a (ARows cols (rows_of t (d_data w)))
-                       | None => is_error a
-                       end
-           | None => is_error a
-           end
-         | _ => match a with ARows _ _ | AHist _ _ => want_commit r v t a | _ => true end   (* refusing is fine; rows must be the right ones *)
-         end
-C    if revdb_denotes r v then want_commit r v t a
-    else match (norm_base r (fst v), snd v) with
-         | (BBranch b, []) =>                         (* dirty branch: `db/branch` is the branch's working set *)
-           match branch_working r b with
-           | Some w => match assoc t (d_schema w) with
-                       | Some cols => ans_eqb a (ARows cols (rows_of t (d_data w)))
-                       | None => is_error a
-                       end
-           | None => is_error a
-           end
-         | _ => match a with ARows _ _ | AHist _ _ => want_commit r v t a | _ => true end   (* refusing is fine; rows must be the right ones *)
-         end
-T    if revdb_denotes r v then want_commit r v t a
-    else match (norm_base r (fst v), snd v) with
-         | (BBranch b, []) =>                         (* dirty branch: `db/branch` is the branch's working set *)
-           match branch_working r b with
-           | Some w => match assoc t (d_schema w) with
-                       | Some cols => ans_eqb a (ARows cols (rows_of t (d_data w)))
-                       | None => is_error a
-                       end
-           | None => is_error a
-           end
-         | _ => match a with ARows _ _ | AHist _ _ => want_commit r v t a | _ => true end   (* refusing is fine; rows must be the right ones *)
-         end
-     if revdb_denotes r v then want_commit r v t a
-    else match (norm_base r (fst v), snd v) with
-         | (BBranch b, []) =>                         (* dirty branch: `db/branch` is the branch's working set *)
-           match branch_working r b with
-           | Some w => match assoc t (d_schema w) with
-                       | Some cols => ans_eqb a (ARows cols (rows_of t (d_data w)))
-                       | None => is_error a
-                       end
-           | None => is_error a
-           end
-         | _ => match a with ARows _ _ | AHist _ _ => want_commit r v t a | _ => true end   (* refusing is fine; rows must be the right ones *)
-         end
-*    if revdb_denotes r v then want_commit r v t a
-    else match (norm_base r (fst v), snd v) with
-         | (BBranch b, []) =>                         (* dirty branch: `db/branch` is the branch's working set *)
-           match branch_working r b with
-           | Some w => match assoc t (d_schema w) with
-                       | Some cols => ans_eqb a (ARows cols (rows_of t (d_data w)))
-                       | None => is_error a
-                       end
-           | None => is_error a
-           end
-         | _ => match a with ARows _ _ | AHist _ _ => want_commit r v t a | _ => true end   (* refusing is fine; rows must be the right ones *)
-         end
-     if revdb_denotes r v then want_commit r v t a
-    else match (norm_base r (fst v), snd v) with
-         | (BBranch b, []) =>                         (* dirty branch: `db/branch` is the branch's working set *)
-           match branch_working r b with
-           | Some w => match assoc t (d_schema w) with
-                       | Some cols => ans_eqb a (ARows cols (rows_of t (d_data w)))
-                       | None => is_error a
-                       end
-           | None => is_error a
-           end
-         | _ => match a with ARows _ _ | AHist _ _ => want_commit r v t a | _ => true end   (* refusing is fine; rows must be the right ones *)
-         end
-F    if revdb_denotes r v then want_commit r v t a
-    else match (norm_base r (fst v), snd v) with
-         | (BBranch b, []) =>                         (* dirty branch: `db/branch` is the branch's working set *)
-           match branch_working r b with
-           | Some w => match assoc t (d_schema w) with
-                       | Some cols => ans_eqb a (ARows cols (rows_of t (d_data w)))
-                       | None => is_error a
-                       end
-           | None => is_error a
-           end
-         | _ => match a with ARows _ _ | AHist _ _ => want_commit r v t a | _ => true end   (* refusing is fine; rows must be the right ones *)
-         end
-R    if revdb_denotes r v then want_commit r v t a
-    else match (norm_base r (fst v), snd v) with
-         | (BBranch b, []) =>                         (* dirty branch: `db/branch` is the branch's working set *)
-           match branch_working r b with
-           | Some w => match assoc t (d_schema w) with
-                       | Some cols => ans_eqb a (ARows cols (rows_of t (d_data w)))
-                       | None => is_error a
-                       end
-           | None => is_error a
-           end
-         | _ => match a with ARows _ _ | AHist _ _ => want_commit r v t a | _ => true end   (* refusing is fine; rows must be the right ones *)
-         end
-O    if revdb_denotes r v then want_commit r v t a
-    else match (norm_base r (fst v), snd v) with
-         | (BBranch b, []) =>                         (* dirty branch: `db/branch` is the branch's working set *)
-           match branch_working r b with
-           | Some w => match assoc t (d_schema w) with
-                       | Some cols => ans_eqb a (ARows cols (rows_of t (d_data w)))
-                       | None => is_error a
-                       end
-           | None => is_error a
-           end
-         | _ => match a with ARows _ _ | AHist _ _ => want_commit r v t a | _ => true end   (* refusing is fine; rows must be the right ones *)
-         end
-M    if revdb_denotes r v then want_commit r v t a
-    else match (norm_base r (fst v), snd v) with
-         | (BBranch b, []) =>                         (* dirty branch: `db/branch` is the branch's working set *)
-           match branch_working r b with
-           | Some w => match assoc t (d_schema w) with
-                       | Some cols => ans_eqb a (ARows cols (rows_of t (d_data w)))
-                       | None => is_error a
-                       end
-           | None => is_error a
-           end
-         | _ => match a with ARows _ _ | AHist _ _ => want_commit r v t a | _ => true end   (* refusing is fine; rows must be the right ones *)
-         end
-     if revdb_denotes r v then want_commit r v t a
-    else match (norm_base r (fst v), snd v) with
-         | (BBranch b, []) =>                         (* dirty branch: `db/branch` is the branch's working set *)
-           match branch_working r b with
-           | Some w => match assoc t (d_schema w) with
-                       | Some cols => ans_eqb a (ARows cols (rows_of t (d_data w)))
-                       | None => is_error a
-                       end
-           | None => is_error a
-           end
-         | _ => match a with ARows _ _ | AHist _ _ => want_commit r v t a | _ => true end   (* refusing is fine; rows must be the right ones *)
-         end
-d    if revdb_denotes r v then want_commit r v t a
-    else match (norm_base r (fst v), snd v) with
-         | (BBranch b, []) =>                         (* dirty branch: `db/branch` is the branch's working set *)
-           match branch_working r b with
-           | Some w => match assoc t (d_schema w) with
-                       | Some cols => ans_eqb a (ARows cols (rows_of t (d_data w)))
-                       | None => is_error a
-                       end
-           | None => is_error a
-           end
-         | _ => match a with ARows _ _ | AHist _ _ => want_commit r v t a | _ => true end   (* refusing is fine; rows must be the right ones *)
-         end
-o    if revdb_denotes r v then want_commit r v t a
-    else match (norm_base r (fst v), snd v) with
-         | (BBranch b, []) =>                         (* dirty branch: `db/branch` is the branch's working set *)
-           match branch_working r b with
-           | Some w => match assoc t (d_schema w) with
-                       | Some cols => ans_eqb a (ARows cols (rows_of t (d_data w)))
-                       | None => is_error a
-                       end
-           | None => is_error a
-           end
-         | _ => match a with ARows _ _ | AHist _ _ => want_commit r v t a | _ => true end   (* refusing is fine; rows must be the right ones *)
-         end
-l    if revdb_denotes r v then want_commit r v t a
-    else match (norm_base r (fst v), snd v) with
-         | (BBranch b, []) =>                         (* dirty branch: `db/branch` is the branch's working set *)
-           match branch_working r b with
-           | Some w => match assoc t (d_schema w) with
-                       | Some cols => ans_eqb a (ARows cols (rows_of t (d_data w)))
-                       | None => is_error a
-                       end
-           | None => is_error a
-           end
-         | _ => match a with ARows _ _ | AHist _ _ => want_commit r v t a | _ => true end   (* refusing is fine; rows must be the right ones *)
-         end
-t    if revdb_denotes r v then want_commit r v t a
-    else match (norm_base r (fst v), snd v) with
-         | (BBranch b, []) =>                         (* dirty branch: `db/branch` is the branch's working set *)
-           match branch_working r b with
-           | Some w => match assoc t (d_schema w) with
-                       | Some cols => ans_eqb a (ARows cols (rows_of t (d_data w)))
-                       | None => is_error a
-                       end
-           | None => is_error a
-           end
-         | _ => match a with ARows _ _ | AHist _ _ => want_commit r v t a | _ => true end   (* refusing is fine; rows must be the right ones *)
-         end
-_    if revdb_denotes r v then want_commit r v t a
-    else match (norm_base r (fst v), snd v) with
-         | (BBranch b, []) =>                         (* dirty branch: `db/branch` is the branch's working set *)
-           match branch_working r b with
-           | Some w => match assoc t (d_schema w) with
-                       | Some cols => ans_eqb a (ARows cols (rows_of t (d_data w)))
-                       | None => is_error a
-                       end
-           | None => is_error a
-           end
-         | _ => match a with ARows _ _ | AHist _ _ => want_commit r v t a | _ => true end   (* refusing is fine; rows must be the right ones *)
-         end
-h    if revdb_denotes r v then want_commit r v t a
-    else match (norm_base r (fst v), snd v) with
-         | (BBranch b, []) =>                         (* dirty branch: `db/branch` is the branch's working set *)
-           match branch_working r b with
-           | Some w => match assoc t (d_schema w) with
-                       | Some cols => ans_eqb a (ARows cols (rows_of t (d_data w)))
-                       | None => is_error a
-                       end
-           | None => is_error a
-           end
-         | _ => match a with ARows _ _ | AHist _ _ => want_commit r v t a | _ => true end   (* refusing is fine; rows must be the right ones *)
-         end
-i    if revdb_denotes r v then want_commit r v t a
-    else match (norm_base r (fst v), snd v) with
-         | (BBranch b, []) =>                         (* dirty branch: `db/branch` is the branch's working set *)
-           match branch_working r b with
-           | Some w => match assoc t (d_schema w) with
-                       | Some cols => ans_eqb a (ARows cols (rows_of t (d_data w)))
-                       | None => is_error a
-                       end
-           | None => is_error a
-           end
-         | _ => match a with ARows _ _ | AHist _ _ => want_commit r v t a | _ => true end   (* refusing is fine; rows must be the right ones *)
-         end
-s    if revdb_denotes r v then want_commit r v t a
-    else match (norm_base r (fst v), snd v) with
-         | (BBranch b, []) =>                         (* dirty branch: `db/branch` is the branch's working set *)
-           match branch_working r b with
-           | Some w => match assoc t (d_schema w) with
-                       | Some cols => ans_eqb a (ARows cols (rows_of t (d_data w)))
-                       | None => is_error a
-                       end
-           | None => is_error a
-           end
-         | _ => match a with ARows _ _ | AHist _ _ => want_commit r v t a | _ => true end   (* refusing is fine; rows must be the right ones *)
-         end
-t    if revdb_denotes r v then want_commit r v t a
-    else match (norm_base r (fst v), snd v) with
-         | (BBranch b, []) =>                         (* dirty branch: `db/branch` is the branch's working set *)
-           match branch_working r b with
-           | Some w => match assoc t (d_schema w) with
-                       | Some cols => ans_eqb a (ARows cols (rows_of t (d_data w)))
-                       | None => is_error a
-                       end
-           | None => is_error a
-           end
-         | _ => match a with ARows _ _ | AHist _ _ => want_commit r v t a | _ => true end   (* refusing is fine; rows must be the right ones *)
-         end
-o    if revdb_denotes r v then want_commit r v t a
-    else match (norm_base r (fst v), snd v) with
-         | (BBranch b, []) =>                         (* dirty branch: `db/branch` is the branch's working set *)
-           match branch_working r b with
-           | Some w => match assoc t (d_schema w) with
-                       | Some cols => ans_eqb a (ARows cols (rows_of t (d_data w)))
-                       | None => is_error a
-                       end
-           | None => is_error a
-           end
-         | _ => match a with ARows _ _ | AHist _ _ => want_commit r v t a | _ => true end   (* refusing is fine; rows must be the right ones *)
-         end
-r    if revdb_denotes r v then want_commit r v t a
-    else match (norm_base r (fst v), snd v) with
-         | (BBranch b, []) =>                         (* dirty branch: `db/branch` is the branch's working set *)
-           match branch_working r b with
-           | Some w => match assoc t (d_schema w) with
-                       | Some cols => ans_eqb a (ARows cols (rows_of t (d_data w)))
-                       | None => is_error a
-                       end
-           | None => is_error a
-           end
-         | _ => match a with ARows _ _ | AHist _ _ => want_commit r v t a | _ => true end   (* refusing is fine; rows must be the right ones *)
-         end
-y    if revdb_denotes r v then want_commit r v t a
-    else match (norm_base r (fst v), snd v) with
-         | (BBranch b, []) =>                         (* dirty branch: `db/branch` is the branch's working set *)
-           match branch_working r b with
-           | Some w => match assoc t (d_schema w) with
-                       | Some cols => ans_eqb a (ARows cols (rows_of t (d_data w)))
-                       | None => is_error a
-                       end
-           | None => is_error a
-           end
-         | _ => match a with ARows _ _ | AHist _ _ => want_commit r v t a | _ => true end   (* refusing is fine; rows must be the right ones *)
-         end
-_    if revdb_denotes r v then want_commit r v t a
-    else match (norm_base r (fst v), snd v) with
-         | (BBranch b, []) =>                         (* dirty branch: `db/branch` is the branch's working set *)
-           match branch_working r b with
-           | Some w => match assoc t (d_schema w) with
-                       | Some cols => ans_eqb a (ARows cols (rows_of t (d_data w)))
-                       | None => is_error a
-                       end
-           | None => is_error a
-           end
-         | _ => match a with ARows _ _ | AHist _ _ => want_commit r v t a | _ => true end   (* refusing is fine; rows must be the right ones *)
-         end
-t    if revdb_denotes r v then want_commit r v t a
-    else match (norm_base r (fst v), snd v) with
-         | (BBranch b, []) =>                         (* dirty branch: `db/branch` is the branch's working set *)
-           match branch_working r b with
-           | Some w => match assoc t (d_schema w) with
-                       | Some cols => ans_eqb a (ARows cols (rows_of t (d_data w)))
-                       | None => is_error a
-                       end
-           | None => is_error a
-           end
-         | _ => match a with ARows _ _ | AHist _ _ => want_commit r v t a | _ => true end   (* refusing is fine; rows must be the right ones *)
-         end
-     if revdb_denotes r v then want_commit r v t a
-    else match (norm_base r (fst v), snd v) with
-         | (BBranch b, []) =>                         (* dirty branch: `db/branch` is the branch's working set *)
-           match branch_working r b with
-           | Some w => match assoc t (d_schema w) with
-                       | Some cols => ans_eqb a (ARows cols (rows_of t (d_data w)))
-                       | None => is_error a
-                       end
-           | None => is_error a
-           end
-         | _ => match a with ARows _ _ | AHist _ _ => want_commit r v t a | _ => true end   (* refusing is fine; rows must be the right ones *)
-         end
-W    if revdb_denotes r v then want_commit r v t a
-    else match (norm_base r (fst v), snd v) with
-         | (BBranch b, []) =>                         (* dirty branch: `db/branch` is the branch's working set *)
-           match branch_working r b with
-           | Some w => match assoc t (d_schema w) with
-                       | Some cols => ans_eqb a (ARows cols (rows_of t (d_data w)))
-                       | None => is_error a
-                       end
-           | None => is_error a
-           end
-         | _ => match a with ARows _ _ | AHist _ _ => want_commit r v t a | _ => true end   (* refusing is fine; rows must be the right ones *)
-         end
-H    if revdb_denotes r v then want_commit r v t a
-    else match (norm_base r (fst v), snd v) with
-         | (BBranch b, []) =>                         (* dirty branch: `db/branch` is the branch's working set *)
-           match branch_working r b with
-           | Some w => match assoc t (d_schema w) with
-                       | Some cols => ans_eqb a (ARows cols (rows_of t (d_data w)))
-                       | None => is_error a
-                       end
-           | None => is_error a
-           end
-         | _ => match a with ARows _ _ | AHist _ _ => want_commit r v t a | _ => true end   (* refusing is fine; rows must be the right ones *)
-         end
-E    if revdb_denotes r v then want_commit r v t a
-    else match (norm_base r (fst v), snd v) with
-         | (BBranch b, []) =>                         (* dirty branch: `db/branch` is the branch's working set *)
-           match branch_working r b with
-           | Some w => match assoc t (d_schema w) with
-                       | Some cols => ans_eqb a (ARows cols (rows_of t (d_data w)))
-                       | None => is_error a
-                       end
-           | None => is_error a
-           end
-         | _ => match a with ARows _ _ | AHist _ _ => want_commit r v t a | _ => true end   (* refusing is fine; rows must be the right ones *)
-         end
-R    if revdb_denotes r v then want_commit r v t a
-    else match (norm_base r (fst v), snd v) with
-         | (BBranch b, []) =>                         (* dirty branch: `db/branch` is the branch's working set *)
-           match branch_working r b with
-           | Some w => match assoc t (d_schema w) with
-                       | Some cols => ans_eqb a (ARows cols (rows_of t (d_data w)))
-                       | None => is_error a
-                       end
-           | None => is_error a
-           end
-         | _ => match a with ARows _ _ | AHist _ _ => want_commit r v t a | _ => true end   (* refusing is fine; rows must be the right ones *)
-         end
-E    if revdb_denotes r v then want_commit r v t a
-    else match (norm_base r (fst v), snd v) with
-         | (BBranch b, []) =>                         (* dirty branch: `db/branch` is the branch's working set *)
-           match branch_working r b with
-           | Some w => match assoc t (d_schema w) with
-                       | Some cols => ans_eqb a (ARows cols (rows_of t (d_data w)))
-                       | None => is_error a
-                       end
-           | None => is_error a
-           end
-         | _ => match a with ARows _ _ | AHist _ _ => want_commit r v t a | _ => true end   (* refusing is fine; rows must be the right ones *)
-         end
-     if revdb_denotes r v then want_commit r v t a
-    else match (norm_base r (fst v), snd v) with
-         | (BBranch b, []) =>                         (* dirty branch: `db/branch` is the branch's working set *)
-           match branch_working r b with
-           | Some w => match assoc t (d_schema w) with
-                       | Some cols => ans_eqb a (ARows cols (rows_of t (d_data w)))
-                       | None => is_error a
-                       end
-           | None => is_error a
-           end
-         | _ => match a with ARows _ _ | AHist _ _ => want_commit r v t a | _ => true end   (* refusing is fine; rows must be the right ones *)
-         end
-c    if revdb_denotes r v then want_commit r v t a
-    else match (norm_base r (fst v), snd v) with
-         | (BBranch b, []) =>                         (* dirty branch: `db/branch` is the branch's working set *)
-           match branch_working r b with
-           | Some w => match assoc t (d_schema w) with
-                       | Some cols => ans_eqb a (ARows cols (rows_of t (d_data w)))
-                       | None => is_error a
-                       end
-           | None => is_error a
-           end
-         | _ => match a with ARows _ _ | AHist _ _ => want_commit r v t a | _ => true end   (* refusing is fine; rows must be the right ones *)
-         end
-o    if revdb_denotes r v then want_commit r v t a
-    else match (norm_base r (fst v), snd v) with
-         | (BBranch b, []) =>                         (* dirty branch: `db/branch` is the branch's working set *)
-           match branch_working r b with
-           | Some w => match assoc t (d_schema w) with
-                       | Some cols => ans_eqb a (ARows cols (rows_of t (d_data w)))
-                       | None => is_error a
-                       end
-           | None => is_error a
-           end
-         | _ => match a with ARows _ _ | AHist _ _ => want_commit r v t a | _ => true end   (* refusing is fine; rows must be the right ones *)
-         end
-m    if revdb_denotes r v then want_commit r v t a
-    else match (norm_base r (fst v), snd v) with
-         | (BBranch b, []) =>                         (* dirty branch: `db/branch` is the branch's working set *)
-           match branch_working r b with
-           | Some w => match assoc t (d_schema w) with
-                       | Some cols => ans_eqb a (ARows cols (rows_of t (d_data w)))
-                       | None => is_error a
-                       end
-           | None => is_error a
-           end
-         | _ => match a with ARows _ _ | AHist _ _ => want_commit r v t a | _ => true end   (* refusing is fine; rows must be the right ones *)
-         end
-m    if revdb_denotes r v then want_commit r v t a
-    else match (norm_base r (fst v), snd v) with
-         | (BBranch b, []) =>                         (* dirty branch: `db/branch` is the branch's working set *)
-           match branch_working r b with
-           | Some w => match assoc t (d_schema w) with
-                       | Some cols => ans_eqb a (ARows cols (rows_of t (d_data w)))
-                       | None => is_error a
-                       end
-           | None => is_error a
-           end
-         | _ => match a with ARows _ _ | AHist _ _ => want_commit r v t a | _ => true end   (* refusing is fine; rows must be the right ones *)
-         end
-i    if revdb_denotes r v then want_commit r v t a
-    else match (norm_base r (fst v), snd v) with
-         | (BBranch b, []) =>                         (* dirty branch: `db/branch` is the branch's working set *)
-           match branch_working r b with
-           | Some w => match assoc t (d_schema w) with
-                       | Some cols => ans_eqb a (ARows cols (rows_of t (d_data w)))
-                       | None => is_error a
-                       end
-           | None => is_error a
-           end
-         | _ => match a with ARows _ _ | AHist _ _ => want_commit r v t a | _ => true end   (* refusing is fine; rows must be the right ones *)
-         end
-t    if revdb_denotes r v then want_commit r v t a
-    else match (norm_base r (fst v), snd v) with
-         | (BBranch b, []) =>                         (* dirty branch: `db/branch` is the branch's working set *)
-           match branch_working r b with
-           | Some w => match assoc t (d_schema w) with
-                       | Some cols => ans_eqb a (ARows cols (rows_of t (d_data w)))
-                       | None => is_error a
-                       end
-           | None => is_error a
-           end
-         | _ => match a with ARows _ _ | AHist _ _ => want_commit r v t a | _ => true end   (* refusing is fine; rows must be the right ones *)
-         end
-_    if revdb_denotes r v then want_commit r v t a
-    else match (norm_base r (fst v), snd v) with
-         | (BBranch b, []) =>                         (* dirty branch: `db/branch` is the branch's working set *)
-           match branch_working r b with
-           | Some w => match assoc t (d_schema w) with
-                       | Some cols => ans_eqb a (ARows cols (rows_of t (d_data w)))
-                       | None => is_error a
-                       end
-           | None => is_error a
-           end
-         | _ => match a with ARows _ _ | AHist _ _ => want_commit r v t a | _ => true end   (* refusing is fine; rows must be the right ones *)
-         end
-h    if revdb_denotes r v then want_commit r v t a
-    else match (norm_base r (fst v), snd v) with
-         | (BBranch b, []) =>                         (* dirty branch: `db/branch` is the branch's working set *)
-           match branch_working r b with
-           | Some w => match assoc t (d_schema w) with
-                       | Some cols => ans_eqb a (ARows cols (rows_of t (d_data w)))
-                       | None => is_error a
-                       end
-           | None => is_error a
-           end
-         | _ => match a with ARows _ _ | AHist _ _ => want_commit r v t a | _ => true end   (* refusing is fine; rows must be the right ones *)
-         end
-a    if revdb_denotes r v then want_commit r v t a
-    else match (norm_base r (fst v), snd v) with
-         | (BBranch b, []) =>                         (* dirty branch: `db/branch` is the branch's working set *)
-           match branch_working r b with
-           | Some w => match assoc t (d_schema w) with
-                       | Some cols => ans_eqb a (ARows cols (rows_of t (d_data w)))
-                       | None => is_error a
-                       end
-           | None => is_error a
-           end
-         | _ => match a with ARows _ _ | AHist _ _ => want_commit r v t a | _ => true end   (* refusing is fine; rows must be the right ones *)
-         end
-s    if revdb_denotes r v then want_commit r v t a
-    else match (norm_base r (fst v), snd v) with
-         | (BBranch b, []) =>                         (* dirty branch: `db/branch` is the branch's working set *)
-           match branch_working r b with
-           | Some w => match assoc t (d_schema w) with
-                       | Some cols => ans_eqb a (ARows cols (rows_of t (d_data w)))
-                       | None => is_error a
-                       end
-           | None => is_error a
-           end
-         | _ => match a with ARows _ _ | AHist _ _ => want_commit r v t a | _ => true end   (* refusing is fine; rows must be the right ones *)
-         end
-h    if revdb_denotes r v then want_commit r v t a
-    else match (norm_base r (fst v), snd v) with
-         | (BBranch b, []) =>                         (* dirty branch: `db/branch` is the branch's working set *)
-           match branch_working r b with
-           | Some w => match assoc t (d_schema w) with
-                       | Some cols => ans_eqb a (ARows cols (rows_of t (d_data w)))
-                       | None => is_error a
-                       end
-           | None => is_error a
-           end
-         | _ => match a with ARows _ _ | AHist _ _ => want_commit r v t a | _ => true end   (* refusing is fine; rows must be the right ones *)
-         end
-     if revdb_denotes r v then want_commit r v t a
-    else match (norm_base r (fst v), snd v) with
-         | (BBranch b, []) =>                         (* dirty branch: `db/branch` is the branch's working set *)
-           match branch_working r b with
-           | Some w => match assoc t (d_schema w) with
-                       | Some cols => ans_eqb a (ARows cols (rows_of t (d_data w)))
-                       | None => is_error a
-                       end
-           | None => is_error a
-           end
-         | _ => match a with ARows _ _ | AHist _ _ => want_commit r v t a | _ => true end   (* refusing is fine; rows must be the right ones *)
-         end
-=    if revdb_denotes r v then want_commit r v t a
-    else match (norm_base r (fst v), snd v) with
-         | (BBranch b, []) =>                         (* dirty branch: `db/branch` is the branch's working set *)
-           match branch_working r b with
-           | Some w => match assoc t (d_schema w) with
-                       | Some cols => ans_eqb a (ARows cols (rows_of t (d_data w)))
-                       | None => is_error a
-                       end
-           | None => is_error a
-           end
-         | _ => match a with ARows _ _ | AHist _ _ => want_commit r v t a | _ => true end   (* refusing is fine; rows must be the right ones *)
-         end
-     if revdb_denotes r v then want_commit r v t a
-    else match (norm_base r (fst v), snd v) with
-         | (BBranch b, []) =>                         (* dirty branch: `db/branch` is the branch's working set *)
-           match branch_working r b with
-           | Some w => match assoc t (d_schema w) with
-                       | Some cols => ans_eqb a (ARows cols (rows_of t (d_data w)))
-                       | None => is_error a
-                       end
-           | None => is_error a
-           end
-         | _ => match a with ARows _ _ | AHist _ _ => want_commit r v t a | _ => true end   (* refusing is fine; rows must be the right ones *)
-         end
-'    if revdb_denotes r v then want_commit r v t a
-    else match (norm_base r (fst v), snd v) with
-         | (BBranch b, []) =>                         (* dirty branch: `db/branch` is the branch's working set *)
-           match branch_working r b with
-           | Some w => match assoc t (d_schema w) with
-                       | Some cols => ans_eqb a (ARows cols (rows_of t (d_data w)))
-                       | None => is_error a
-                       end
-           | None => is_error a
-           end
-         | _ => match a with ARows _ _ | AHist _ _ => want_commit r v t a | _ => true end   (* refusing is fine; rows must be the right ones *)
-         end
-<    if revdb_denotes r v then want_commit r v t a
-    else match (norm_base r (fst v), snd v) with
-         | (BBranch b, []) =>                         (* dirty branch: `db/branch` is the branch's working set *)
-           match branch_working r b with
-           | Some w => match assoc t (d_schema w) with
-                       | Some cols => ans_eqb a (ARows cols (rows_of t (d_data w)))
-                       | None => is_error a
-                       end
-           | None => is_error a
-           end
-         | _ => match a with ARows _ _ | AHist _ _ => want_commit r v t a | _ => true end   (* refusing is fine; rows must be the right ones *)
-         end
-c    if revdb_denotes r v then want_commit r v t a
-    else match (norm_base r (fst v), snd v) with
-         | (BBranch b, []) =>                         (* dirty branch: `db/branch` is the branch's working set *)
-           match branch_working r b with
-           | Some w => match assoc t (d_schema w) with
-                       | Some cols => ans_eqb a (ARows cols (rows_of t (d_data w)))
-                       | None => is_error a
-                       end
-           | None => is_error a
-           end
-         | _ => match a with ARows _ _ | AHist _ _ => want_commit r v t a | _ => true end   (* refusing is fine; rows must be the right ones *)
-         end
->    if revdb_denotes r v then want_commit r v t a
-    else match (norm_base r (fst v), snd v) with
-         | (BBranch b, []) =>                         (* dirty branch: `db/branch` is the branch's working set *)
-           match branch_working r b with
-           | Some w => match assoc t (d_schema w) with
-                       | Some cols => ans_eqb a (ARows cols (rows_of t (d_data w)))
-                       | None => is_error a
-                       end
-           | None => is_error a
-           end
-         | _ => match a with ARows _ _ | AHist _ _ => want_commit r v t a | _ => true end   (* refusing is fine; rows must be the right ones *)
-         end
-'    if revdb_denotes r v then want_commit r v t a
-    else match (norm_base r (fst v), snd v) with
-         | (BBranch b, []) =>                         (* dirty branch: `db/branch` is the branch's working set *)
-           match branch_working r b with
-           | Some w => match assoc t (d_schema w) with
-                       | Some cols => ans_eqb a (ARows cols (rows_of t (d_data w)))
-                       | None => is_error a
-                       end
-           | None => is_error a
-           end
-         | _ => match a with ARows _ _ | AHist _ _ => want_commit r v t a | _ => true end   (* refusing is fine; rows must be the right ones *)
-         end
-     if revdb_denotes r v then want_commit r v t a
-    else match (norm_base r (fst v), snd v) with
-         | (BBranch b, []) =>                         (* dirty branch: `db/branch` is the branch's working set *)
-           match branch_working r b with
-           | Some w => match assoc t (d_schema w) with
-                       | Some cols => ans_eqb a (ARows cols (rows_of t (d_data w)))
-                       | None => is_error a
-                       end
-           | None => is_error a
-           end
-         | _ => match a with ARows _ _ | AHist _ _ => want_commit r v t a | _ => true end   (* refusing is fine; rows must be the right ones *)
-         end
-*    if revdb_denotes r v then want_commit r v t a
-    else match (norm_base r (fst v), snd v) with
-         | (BBranch b, []) =>                         (* dirty branch: `db/branch` is the branch's working set *)
-           match branch_working r b with
-           | Some w => match assoc t (d_schema w) with
-                       | Some cols => ans_eqb a (ARows cols (rows_of t (d_data w)))
-                       | None => is_error a
-                       end
-           | None => is_error a
-           end
-         | _ => match a with ARows _ _ | AHist _ _ => want_commit r v t a | _ => true end   (* refusing is fine; rows must be the right ones *)
-         end
-)    if revdb_denotes r v then want_commit r v t a
-    else match (norm_base r (fst v), snd v) with
-         | (BBranch b, []) =>                         (* dirty branch: `db/branch` is the branch's working set *)
-           match branch_working r b with
-           | Some w => match assoc t (d_schema w) with
-                       | Some cols => ans_eqb a (ARows cols (rows_of t (d_data w)))
-                       | None => is_error a
-                       end
-           | None => is_error a
-           end
-         | _ => match a with ARows _ _ | AHist _ _ => want_commit r v t a | _ => true end   (* refusing is fine; rows must be the right ones *)
-         end
-
-    if revdb_denotes r v then want_commit r v t a
-    else match (norm_base r (fst v), snd v) with
-         | (BBranch b, []) =>                         (* dirty branch: `db/branch` is the branch's working set *)
-           match branch_working r b with
-           | Some w => match assoc t (d_schema w) with
-                       | Some cols => ans_eqb a (ARows cols (rows_of t (d_data w)))
-                       | None => is_error a
-                       end
-           | None => is_error a
-           end
-         | _ => match a with ARows _ _ | AHist _ _ => want_commit r v t a | _ => true end   (* refusing is fine; rows must be the right ones *)
-         end
-|    if revdb_denotes r v then want_commit r v t a
-    else match (norm_base r (fst v), snd v) with
-         | (BBranch b, []) =>                         (* dirty branch: `db/branch` is the branch's working set *)
-           match branch_working r b with
-           | Some w => match assoc t (d_schema w) with
-                       | Some cols => ans_eqb a (ARows cols (rows_of t (d_data w)))
-                       | None => is_error a
-                       end
-           | None => is_error a
-           end
-         | _ => match a with ARows _ _ | AHist _ _ => want_commit r v t a | _ => true end   (* refusing is fine; rows must be the right ones *)
-         end
-     if revdb_denotes r v then want_commit r v t a
-    else match (norm_base r (fst v), snd v) with
-         | (BBranch b, []) =>                         (* dirty branch: `db/branch` is the branch's working set *)
-           match branch_working r b with
-           | Some w => match assoc t (d_schema w) with
-                       | Some cols => ans_eqb a (ARows cols (rows_of t (d_data w)))
-                       | None => is_error a
-                       end
-           | None => is_error a
-           end
-         | _ => match a with ARows _ _ | AHist _ _ => want_commit r v t a | _ => true end   (* refusing is fine; rows must be the right ones *)
-         end
-Q    if revdb_denotes r v then want_commit r v t a
-    else match (norm_base r (fst v), snd v) with
-         | (BBranch b, []) =>                         (* dirty branch: `db/branch` is the branch's working set *)
-           match branch_working r b with
-           | Some w => match assoc t (d_schema w) with
-                       | Some cols => ans_eqb a (ARows cols (rows_of t (d_data w)))
-                       | None => is_error a
-                       end
-           | None => is_error a
-           end
-         | _ => match a with ARows _ _ | AHist _ _ => want_commit r v t a | _ => true end   (* refusing is fine; rows must be the right ones *)
-         end
-H    if revdb_denotes r v then want_commit r v t a
-    else match (norm_base r (fst v), snd v) with
-         | (BBranch b, []) =>                         (* dirty branch: `db/branch` is the branch's working set *)
-           match branch_working r b with
-           | Some w => match assoc t (d_schema w) with
-                       | Some cols => ans_eqb a (ARows cols (rows_of t (d_data w)))
-                       | None => is_error a
-                       end
-           | None => is_error a
-           end
-         | _ => match a with ARows _ _ | AHist _ _ => want_commit r v t a | _ => true end   (* refusing is fine; rows must be the right ones *)
-         end
-i    if revdb_denotes r v then want_commit r v t a
-    else match (norm_base r (fst v), snd v) with
-         | (BBranch b, []) =>                         (* dirty branch: `db/branch` is the branch's working set *)
-           match branch_working r b with
-           | Some w => match assoc t (d_schema w) with
-                       | Some cols => ans_eqb a (ARows cols (rows_of t (d_data w)))
-                       | None => is_error a
-                       end
-           | None => is_error a
-           end
-         | _ => match a with ARows _ _ | AHist _ _ => want_commit r v t a | _ => true end   (* refusing is fine; rows must be the right ones *)
-         end
-s    if revdb_denotes r v then want_commit r v t a
-    else match (norm_base r (fst v), snd v) with
-         | (BBranch b, []) =>                         (* dirty branch: `db/branch` is the branch's working set *)
-           match branch_working r b with
-           | Some w => match assoc t (d_schema w) with
-                       | Some cols => ans_eqb a (ARows cols (rows_of t (d_data w)))
-                       | None => is_error a
-                       end
-           | None => is_error a
-           end
-         | _ => match a with ARows _ _ | AHist _ _ => want_commit r v t a | _ => true end   (* refusing is fine; rows must be the right ones *)
-         end
-t    if revdb_denotes r v then want_commit r v t a
-    else match (norm_base r (fst v), snd v) with
-         | (BBranch b, []) =>                         (* dirty branch: `db/branch` is the branch's working set *)
-           match branch_working r b with
-           | Some w => match assoc t (d_schema w) with
-                       | Some cols => ans_eqb a (ARows cols (rows_of t (d_data w)))
-                       | None => is_error a
-                       end
-           | None => is_error a
-           end
-         | _ => match a with ARows _ _ | AHist _ _ => want_commit r v t a | _ => true end   (* refusing is fine; rows must be the right ones *)
-         end
-A    if revdb_denotes r v then want_commit r v t a
-    else match (norm_base r (fst v), snd v) with
-         | (BBranch b, []) =>                         (* dirty branch: `db/branch` is the branch's working set *)
-           match branch_working r b with
-           | Some w => match assoc t (d_schema w) with
-                       | Some cols => ans_eqb a (ARows cols (rows_of t (d_data w)))
-                       | None => is_error a
-                       end
-           | None => is_error a
-           end
-         | _ => match a with ARows _ _ | AHist _ _ => want_commit r v t a | _ => true end   (* refusing is fine; rows must be the right ones *)
-         end
-l    if revdb_denotes r v then want_commit r v t a
-    else match (norm_base r (fst v), snd v) with
-         | (BBranch b, []) =>                         (* dirty branch: `db/branch` is the branch's working set *)
-           match branch_working r b with
-           | Some w => match assoc t (d_schema w) with
-                       | Some cols => ans_eqb a (ARows cols (rows_of t (d_data w)))
-                       | None => is_error a
-                       end
-           | None => is_error a
-           end
-         | _ => match a with ARows _ _ | AHist _ _ => want_commit r v t a | _ => true end   (* refusing is fine; rows must be the right ones *)
-         end
-l    if revdb_denotes r v then want_commit r v t a
-    else match (norm_base r (fst v), snd v) with
-         | (BBranch b, []) =>                         (* dirty branch: `db/branch` is the branch's working set *)
-           match branch_working r b with
-           | Some w => match assoc t (d_schema w) with
-                       | Some cols => ans_eqb a (ARows cols (rows_of t (d_data w)))
-                       | None => is_error a
-                       end
-           | None => is_error a
-           end
-         | _ => match a with ARows _ _ | AHist _ _ => want_commit r v t a | _ => true end   (* refusing is fine; rows must be the right ones *)
-         end
-     if revdb_denotes r v then want_commit r v t a
-    else match (norm_base r (fst v), snd v) with
-         | (BBranch b, []) =>                         (* dirty branch: `db/branch` is the branch's working set *)
-           match branch_working r b with
-           | Some w => match assoc t (d_schema w) with
-                       | Some cols => ans_eqb a (ARows cols (rows_of t (d_data w)))
-                       | None => is_error a
-                       end
-           | None => is_error a
-           end
-         | _ => match a with ARows _ _ | AHist _ _ => want_commit r v t a | _ => true end   (* refusing is fine; rows must be the right ones *)
-         end
-(    if revdb_denotes r v then want_commit r v t a
-    else match (norm_base r (fst v), snd v) with
-         | (BBranch b, []) =>                         (* dirty branch: `db/branch` is the branch's working set *)
-           match branch_working r b with
-           | Some w => match assoc t (d_schema w) with
-                       | Some cols => ans_eqb a (ARows cols (rows_of t (d_data w)))
-                       | None => is_error a
-                       end
-           | None => is_error a
-           end
-         | _ => match a with ARows _ _ | AHist _ _ => want_commit r v t a | _ => true end   (* refusing is fine; rows must be the right ones *)
-         end
-t    if revdb_denotes r v then want_commit r v t a
-    else match (norm_base r (fst v), snd v) with
-         | (BBranch b, []) =>                         (* dirty branch: `db/branch` is the branch's working set *)
-           match branch_working r b with
-           | Some w => match assoc t (d_schema w) with
-                       | Some cols => ans_eqb a (ARows cols (rows_of t (d_data w)))
-                       | None => is_error a
-                       end
-           | None => is_error a
-           end
-         | _ => match a with ARows _ _ | AHist _ _ => want_commit r v t a | _ => true end   (* refusing is fine; rows must be the right ones *)
-         end
-     if revdb_denotes r v then want_commit r v t a
-    else match (norm_base r (fst v), snd v) with
-         | (BBranch b, []) =>                         (* dirty branch: `db/branch` is the branch's working set *)
-           match branch_working r b with
-           | Some w => match assoc t (d_schema w) with
-                       | Some cols => ans_eqb a (ARows cols (rows_of t (d_data w)))
-                       | None => is_error a
-                       end
-           | None => is_error a
-           end
-         | _ => match a with ARows _ _ | AHist _ _ => want_commit r v t a | _ => true end   (* refusing is fine; rows must be the right ones *)
-         end
-:    if revdb_denotes r v then want_commit r v t a
-    else match (norm_base r (fst v), snd v) with
-         | (BBranch b, []) =>                         (* dirty branch: `db/branch` is the branch's working set *)
-           match branch_working r b with
-           | Some w => match assoc t (d_schema w) with
-                       | Some cols => ans_eqb a (ARows cols (rows_of t (d_data w)))
-                       | None => is_error a
-                       end
-           | None => is_error a
-           end
-         | _ => match a with ARows _ _ | AHist _ _ => want_commit r v t a | _ => true end   (* refusing is fine; rows must be the right ones *)
-         end
-     if revdb_denotes r v then want_commit r v t a
-    else match (norm_base r (fst v), snd v) with
-         | (BBranch b, []) =>                         (* dirty branch: `db/branch` is the branch's working set *)
-           match branch_working r b with
-           | Some w => match assoc t (d_schema w) with
-                       | Some cols => ans_eqb a (ARows cols (rows_of t (d_data w)))
-                       | None => is_error a
-                       end
-           | None => is_error a
-           end
-         | _ => match a with ARows _ _ | AHist _ _ => want_commit r v t a | _ => true end   (* refusing is fine; rows must be the right ones *)
-         end
-N    if revdb_denotes r v then want_commit r v t a
-    else match (norm_base r (fst v), snd v) with
-         | (BBranch b, []) =>                         (* dirty branch: `db/branch` is the branch's working set *)
-           match branch_working r b with
-           | Some w => match assoc t (d_schema w) with
-                       | Some cols => ans_eqb a (ARows cols (rows_of t (d_data w)))
-                       | None => is_error a
-                       end
-           | None => is_error a
-           end
-         | _ => match a with ARows _ _ | AHist _ _ => want_commit r v t a | _ => true end   (* refusing is fine; rows must be the right ones *)
-         end
-)    if revdb_denotes r v then want_commit r v t a
-    else match (norm_base r (fst v), snd v) with
-         | (BBranch b, []) =>                         (* dirty branch: `db/branch` is the branch's working set *)
-           match branch_working r b with
-           | Some w => match assoc t (d_schema w) with
-                       | Some cols => ans_eqb a (ARows cols (rows_of t (d_data w)))
-                       | None => is_error a
-                       end
-           | None => is_error a
-           end
-         | _ => match a with ARows _ _ | AHist _ _ => want_commit r v t a | _ => true end   (* refusing is fine; rows must be the right ones *)
-         end
-.    if revdb_denotes r v then want_commit r v t a
-    else match (norm_base r (fst v), snd v) with
-         | (BBranch b, []) =>                         (* dirty branch: `db/branch` is the branch's working set *)
-           match branch_working r b with
-           | Some w => match assoc t (d_schema w) with
-                       | Some cols => ans_eqb a (ARows cols (rows_of t (d_data w)))
-                       | None => is_error a
-                       end
-           | None => is_error a
-           end
-         | _ => match a with ARows _ _ | AHist _ _ => want_commit r v t a | _ => true end   (* refusing is fine; rows must be the right ones *)
-         end
-     if revdb_denotes r v then want_commit r v t a
-    else match (norm_base r (fst v), snd v) with
-         | (BBranch b, []) =>                         (* dirty branch: `db/branch` is the branch's working set *)
-           match branch_working r b with
-           | Some w => match assoc t (d_schema w) with
-                       | Some cols => ans_eqb a (ARows cols (rows_of t (d_data w)))
-                       | None => is_error a
-                       end
-           | None => is_error a
-           end
-         | _ => match a with ARows _ _ | AHist _ _ => want_commit r v t a | _ => true end   (* refusing is fine; rows must be the right ones *)
-         end
-     if revdb_denotes r v then want_commit r v t a
-    else match (norm_base r (fst v), snd v) with
-         | (BBranch b, []) =>                         (* dirty branch: `db/branch` is the branch's working set *)
-           match branch_working r b with
-           | Some w => match assoc t (d_schema w) with
-                       | Some cols => ans_eqb a (ARows cols (rows_of t (d_data w)))
-                       | None => is_error a
-                       end
-           | None => is_error a
-           end
-         | _ => match a with ARows _ _ | AHist _ _ => want_commit r v t a | _ => true end   (* refusing is fine; rows must be the right ones *)
-         end
-     if revdb_denotes r v then want_commit r v t a
-    else match (norm_base r (fst v), snd v) with
-         | (BBranch b, []) =>                         (* dirty branch: `db/branch` is the branch's working set *)
-           match branch_working r b with
-           | Some w => match assoc t (d_schema w) with
-                       | Some cols => ans_eqb a (ARows cols (rows_of t (d_data w)))
-                       | None => is_error a
-                       end
-           | None => is_error a
-           end
-         | _ => match a with ARows _ _ | AHist _ _ => want_commit r v t a | _ => true end   (* refusing is fine; rows must be the right ones *)
-         end
-     if revdb_denotes r v then want_commit r v t a
-    else match (norm_base r (fst v), snd v) with
-         | (BBranch b, []) =>                         (* dirty branch: `db/branch` is the branch's working set *)
-           match branch_working r b with
-           | Some w => match assoc t (d_schema w) with
-                       | Some cols => ans_eqb a (ARows cols (rows_of t (d_data w)))
-                       | None => is_error a
-                       end
-           | None => is_error a
-           end
-         | _ => match a with ARows _ _ | AHist _ _ => want_commit r v t a | _ => true end   (* refusing is fine; rows must be the right ones *)
-         end
-     if revdb_denotes r v then want_commit r v t a
-    else match (norm_base r (fst v), snd v) with
-         | (BBranch b, []) =>                         (* dirty branch: `db/branch` is the branch's working set *)
-           match branch_working r b with
-           | Some w => match assoc t (d_schema w) with
-                       | Some cols => ans_eqb a (ARows cols (rows_of t (d_data w)))
-                       | None => is_error a
-                       end
-           | None => is_error a
-           end
-         | _ => match a with ARows _ _ | AHist _ _ => want_commit r v t a | _ => true end   (* refusing is fine; rows must be the right ones *)
-         end
-     if revdb_denotes r v then want_commit r v t a
-    else match (norm_base r (fst v), snd v) with
-         | (BBranch b, []) =>                         (* dirty branch: `db/branch` is the branch's working set *)
-           match branch_working r b with
-           | Some w => match assoc t (d_schema w) with
-                       | Some cols => ans_eqb a (ARows cols (rows_of t (d_data w)))
-                       | None => is_error a
-                       end
-           | None => is_error a
-           end
-         | _ => match a with ARows _ _ | AHist _ _ => want_commit r v t a | _ => true end   (* refusing is fine; rows must be the right ones *)
-         end
-     if revdb_denotes r v then want_commit r v t a
-    else match (norm_base r (fst v), snd v) with
-         | (BBranch b, []) =>                         (* dirty branch: `db/branch` is the branch's working set *)
-           match branch_working r b with
-           | Some w => match assoc t (d_schema w) with
-                       | Some cols => ans_eqb a (ARows cols (rows_of t (d_data w)))
-                       | None => is_error a
-                       end
-           | None => is_error a
-           end
-         | _ => match a with ARows _ _ | AHist _ _ => want_commit r v t a | _ => true end   (* refusing is fine; rows must be the right ones *)
-         end
-     if revdb_denotes r v then want_commit r v t a
-    else match (norm_base r (fst v), snd v) with
-         | (BBranch b, []) =>                         (* dirty branch: `db/branch` is the branch's working set *)
-           match branch_working r b with
-           | Some w => match assoc t (d_schema w) with
-                       | Some cols => ans_eqb a (ARows cols (rows_of t (d_data w)))
-                       | None => is_error a
-                       end
-           | None => is_error a
-           end
-         | _ => match a with ARows _ _ | AHist _ _ => want_commit r v t a | _ => true end   (* refusing is fine; rows must be the right ones *)
-         end
-     if revdb_denotes r v then want_commit r v t a
-    else match (norm_base r (fst v), snd v) with
-         | (BBranch b, []) =>                         (* dirty branch: `db/branch` is the branch's working set *)
-           match branch_working r b with
-           | Some w => match assoc t (d_schema w) with
-                       | Some cols => ans_eqb a (ARows cols (rows_of t (d_data w)))
-                       | None => is_error a
-                       end
-           | None => is_error a
-           end
-         | _ => match a with ARows _ _ | AHist _ _ => want_commit r v t a | _ => true end   (* refusing is fine; rows must be the right ones *)
-         end
-     if revdb_denotes r v then want_commit r v t a
-    else match (norm_base r (fst v), snd v) with
-         | (BBranch b, []) =>                         (* dirty branch: `db/branch` is the branch's working set *)
-           match branch_working r b with
-           | Some w => match assoc t (d_schema w) with
-                       | Some cols => ans_eqb a (ARows cols (rows_of t (d_data w)))
-                       | None => is_error a
-                       end
-           | None => is_error a
-           end
-         | _ => match a with ARows _ _ | AHist _ _ => want_commit r v t a | _ => true end   (* refusing is fine; rows must be the right ones *)
-         end
-     if revdb_denotes r v then want_commit r v t a
-    else match (norm_base r (fst v), snd v) with
-         | (BBranch b, []) =>                         (* dirty branch: `db/branch` is the branch's working set *)
-           match branch_working r b with
-           | Some w => match assoc t (d_schema w) with
-                       | Some cols => ans_eqb a (ARows cols (rows_of t (d_data w)))
-                       | None => is_error a
-                       end
-           | None => is_error a
-           end
-         | _ => match a with ARows _ _ | AHist _ _ => want_commit r v t a | _ => true end   (* refusing is fine; rows must be the right ones *)
-         end
-     if revdb_denotes r v then want_commit r v t a
-    else match (norm_base r (fst v), snd v) with
-         | (BBranch b, []) =>                         (* dirty branch: `db/branch` is the branch's working set *)
-           match branch_working r b with
-           | Some w => match assoc t (d_schema w) with
-                       | Some cols => ans_eqb a (ARows cols (rows_of t (d_data w)))
-                       | None => is_error a
-                       end
-           | None => is_error a
-           end
-         | _ => match a with ARows _ _ | AHist _ _ => want_commit r v t a | _ => true end   (* refusing is fine; rows must be the right ones *)
-         end
-     if revdb_denotes r v then want_commit r v t a
-    else match (norm_base r (fst v), snd v) with
-         | (BBranch b, []) =>                         (* dirty branch: `db/branch` is the branch's working set *)
-           match branch_working r b with
-           | Some w => match assoc t (d_schema w) with
-                       | Some cols => ans_eqb a (ARows cols (rows_of t (d_data w)))
-                       | None => is_error a
-                       end
-           | None => is_error a
-           end
-         | _ => match a with ARows _ _ | AHist _ _ => want_commit r v t a | _ => true end   (* refusing is fine; rows must be the right ones *)
-         end
-     if revdb_denotes r v then want_commit r v t a
-    else match (norm_base r (fst v), snd v) with
-         | (BBranch b, []) =>                         (* dirty branch: `db/branch` is the branch's working set *)
-           match branch_working r b with
-           | Some w => match assoc t (d_schema w) with
-                       | Some cols => ans_eqb a (ARows cols (rows_of t (d_data w)))
-                       | None => is_error a
-                       end
-           | None => is_error a
-           end
-         | _ => match a with ARows _ _ | AHist _ _ => want_commit r v t a | _ => true end   (* refusing is fine; rows must be the right ones *)
-         end
-(    if revdb_denotes r v then want_commit r v t a
-    else match (norm_base r (fst v), snd v) with
-         | (BBranch b, []) =>                         (* dirty branch: `db/branch` is the branch's working set *)
-           match branch_working r b with
-           | Some w => match assoc t (d_schema w) with
-                       | Some cols => ans_eqb a (ARows cols (rows_of t (d_data w)))
-                       | None => is_error a
-                       end
-           | None => is_error a
-           end
-         | _ => match a with ARows _ _ | AHist _ _ => want_commit r v t a | _ => true end   (* refusing is fine; rows must be the right ones *)
-         end
-*    if revdb_denotes r v then want_commit r v t a
-    else match (norm_base r (fst v), snd v) with
-         | (BBranch b, []) =>                         (* dirty branch: `db/branch` is the branch's working set *)
-           match branch_working r b with
-           | Some w => match assoc t (d_schema w) with
-                       | Some cols => ans_eqb a (ARows cols (rows_of t (d_data w)))
-                       | None => is_error a
-                       end
-           | None => is_error a
-           end
-         | _ => match a with ARows _ _ | AHist _ _ => want_commit r v t a | _ => true end   (* refusing is fine; rows must be the right ones *)
-         end
-     if revdb_denotes r v then want_commit r v t a
-    else match (norm_base r (fst v), snd v) with
-         | (BBranch b, []) =>                         (* dirty branch: `db/branch` is the branch's working set *)
-           match branch_working r b with
-           | Some w => match assoc t (d_schema w) with
-                       | Some cols => ans_eqb a (ARows cols (rows_of t (d_data w)))
-                       | None => is_error a
-                       end
-           | None => is_error a
-           end
-         | _ => match a with ARows _ _ | AHist _ _ => want_commit r v t a | _ => true end   (* refusing is fine; rows must be the right ones *)
-         end
-S    if revdb_denotes r v then want_commit r v t a
-    else match (norm_base r (fst v), snd v) with
-         | (BBranch b, []) =>                         (* dirty branch: `db/branch` is the branch's working set *)
-           match branch_working r b with
-           | Some w => match assoc t (d_schema w) with
-                       | Some cols => ans_eqb a (ARows cols (rows_of t (d_data w)))
-                       | None => is_error a
-                       end
-           | None => is_error a
-           end
-         | _ => match a with ARows _ _ | AHist _ _ => want_commit r v t a | _ => true end   (* refusing is fine; rows must be the right ones *)
-         end
-E    if revdb_denotes r v then want_commit r v t a
-    else match (norm_base r (fst v), snd v) with
-         | (BBranch b, []) =>                         (* dirty branch: `db/branch` is the branch's working set *)
-           match branch_working r b with
-           | Some w => match assoc t (d_schema w) with
-                       | Some cols => ans_eqb a (ARows cols (rows_of t (d_data w)))
-                       | None => is_error a
-                       end
-           | None => is_error a
-           end
-         | _ => match a with ARows _ _ | AHist _ _ => want_commit r v t a | _ => true end   (* refusing is fine; rows must be the right ones *)
-         end
-L    if revdb_denotes r v then want_commit r v t a
-    else match (norm_base r (fst v), snd v) with
-         | (BBranch b, []) =>                         (* dirty branch: `db/branch` is the branch's working set *)
-           match branch_working r b with
-           | Some w => match assoc t (d_schema w) with
-                       | Some cols => ans_eqb a (ARows cols (rows_of t (d_data w)))
-                       | None => is_error a
-                       end
-           | None => is_error a
-           end
-         | _ => match a with ARows _ _ | AHist _ _ => want_commit r v t a | _ => true end   (* refusing is fine; rows must be the right ones *)
-         end
-E    if revdb_denotes r v then want_commit r v t a
-    else match (norm_base r (fst v), snd v) with
-         | (BBranch b, []) =>                         (* dirty branch: `db/branch` is the branch's working set *)
-           match branch_working r b with
-           | Some w => match assoc t (d_schema w) with
-                       | Some cols => ans_eqb a (ARows cols (rows_of t (d_data w)))
-                       | None => is_error a
-                       end
-           | None => is_error a
-           end
-         | _ => match a with ARows _ _ | AHist _ _ => want_commit r v t a | _ => true end   (* refusing is fine; rows must be the right ones *)
-         end
-C    if revdb_denotes r v then want_commit r v t a
-    else match (norm_base r (fst v), snd v) with
-         | (BBranch b, []) =>                         (* dirty branch: `db/branch` is the branch's working set *)
-           match branch_working r b with
-           | Some w => match assoc t (d_schema w) with
-                       | Some cols => ans_eqb a (ARows cols (rows_of t (d_data w)))
-                       | None => is_error a
-                       end
-           | None => is_error a
-           end
-         | _ => match a with ARows _ _ | AHist _ _ => want_commit r v t a | _ => true end   (* refusing is fine; rows must be the right ones *)
-         end
-T    if revdb_denotes r v then want_commit r v t a
-    else match (norm_base r (fst v), snd v) with
-         | (BBranch b, []) =>                         (* dirty branch: `db/branch` is the branch's working set *)
-           match branch_working r b with
-           | Some w => match assoc t (d_schema w) with
-                       | Some cols => ans_eqb a (ARows cols (rows_of t (d_data w)))
-                       | None => is_error a
-                       end
-           | None => is_error a
-           end
-         | _ => match a with ARows _ _ | AHist _ _ => want_commit r v t a | _ => true end   (* refusing is fine; rows must be the right ones *)
-         end
-     if revdb_denotes r v then want_commit r v t a
-    else match (norm_base r (fst v), snd v) with
-         | (BBranch b, []) =>                         (* dirty branch: `db/branch` is the branch's working set *)
-           match branch_working r b with
-           | Some w => match assoc t (d_schema w) with
-                       | Some cols => ans_eqb a (ARows cols (rows_of t (d_data w)))
-                       | None => is_error a
-                       end
-           | None => is_error a
-           end
-         | _ => match a with ARows _ _ | AHist _ _ => want_commit r v t a | _ => true end   (* refusing is fine; rows must be the right ones *)
-         end
-*    if revdb_denotes r v then want_commit r v t a
-    else match (norm_base r (fst v), snd v) with
-         | (BBranch b, []) =>                         (* dirty branch: `db/branch` is the branch's working set *)
-           match branch_working r b with
-           | Some w => match assoc t (d_schema w) with
-                       | Some cols => ans_eqb a (ARows cols (rows_of t (d_data w)))
-                       | None => is_error a
-                       end
-           | None => is_error a
-           end
-         | _ => match a with ARows _ _ | AHist _ _ => want_commit r v t a | _ => true end   (* refusing is fine; rows must be the right ones *)
-         end
-     if revdb_denotes r v then want_commit r v t a
-    else match (norm_base r (fst v), snd v) with
-         | (BBranch b, []) =>                         (* dirty branch: `db/branch` is the branch's working set *)
-           match branch_working r b with
-           | Some w => match assoc t (d_schema w) with
-                       | Some cols => ans_eqb a (ARows cols (rows_of t (d_data w)))
-                       | None => is_error a
-                       end
-           | None => is_error a
-           end
-         | _ => match a with ARows _ _ | AHist _ _ => want_commit r v t a | _ => true end   (* refusing is fine; rows must be the right ones *)
-         end
-F    if revdb_denotes r v then want_commit r v t a
-    else match (norm_base r (fst v), snd v) with
-         | (BBranch b, []) =>                         (* dirty branch: `db/branch` is the branch's working set *)
-           match branch_working r b with
-           | Some w => match assoc t (d_schema w) with
-                       | Some cols => ans_eqb a (ARows cols (rows_of t (d_data w)))
-                       | None => is_error a
-                       end
-           | None => is_error a
-           end
-         | _ => match a with ARows _ _ | AHist _ _ => want_commit r v t a | _ => true end   (* refusing is fine; rows must be the right ones *)
-         end
-R    if revdb_denotes r v then want_commit r v t a
-    else match (norm_base r (fst v), snd v) with
-         | (BBranch b, []) =>                         (* dirty branch: `db/branch` is the branch's working set *)
-           match branch_working r b with
-           | Some w => match assoc t (d_schema w) with
-                       | Some cols => ans_eqb a (ARows cols (rows_of t (d_data w)))
-                       | None => is_error a
-                       end
-           | None => is_error a
-           end
-         | _ => match a with ARows _ _ | AHist _ _ => want_commit r v t a | _ => true end   (* refusing is fine; rows must be the right ones *)
-         end
-O    if revdb_denotes r v then want_commit r v t a
-    else match (norm_base r (fst v), snd v) with
-         | (BBranch b, []) =>                         (* dirty branch: `db/branch` is the branch's working set *)
-           match branch_working r b with
-           | Some w => match assoc t (d_schema w) with
-                       | Some cols => ans_eqb a (ARows cols (rows_of t (d_data w)))
-                       | None => is_error a
-                       end
-           | None => is_error a
-           end
-         | _ => match a with ARows _ _ | AHist _ _ => want_commit r v t a | _ => true end   (* refusing is fine; rows must be the right ones *)
-         end
-M    if revdb_denotes r v then want_commit r v t a
-    else match (norm_base r (fst v), snd v) with
-         | (BBranch b, []) =>                         (* dirty branch: `db/branch` is the branch's working set *)
-           match branch_working r b with
-           | Some w => match assoc t (d_schema w) with
-                       | Some cols => ans_eqb a (ARows cols (rows_of t (d_data w)))
-                       | None => is_error a
-                       end
-           | None => is_error a
-           end
-         | _ => match a with ARows _ _ | AHist _ _ => want_commit r v t a | _ => true end   (* refusing is fine; rows must be the right ones *)
-         end
-     if revdb_denotes r v then want_commit r v t a
-    else match (norm_base r (fst v), snd v) with
-         | (BBranch b, []) =>                         (* dirty branch: `db/branch` is the branch's working set *)
-           match branch_working r b with
-           | Some w => match assoc t (d_schema w) with
-                       | Some cols => ans_eqb a (ARows cols (rows_of t (d_data w)))
-                       | None => is_error a
-                       end
-           | None => is_error a
-           end
-         | _ => match a with ARows _ _ | AHist _ _ => want_commit r v t a | _ => true end   (* refusing is fine; rows must be the right ones *)
-         end
-d    if revdb_denotes r v then want_commit r v t a
-    else match (norm_base r (fst v), snd v) with
-         | (BBranch b, []) =>                         (* dirty branch: `db/branch` is the branch's working set *)
-           match branch_working r b with
-           | Some w => match assoc t (d_schema w) with
-                       | Some cols => ans_eqb a (ARows cols (rows_of t (d_data w)))
-                       | None => is_error a
-                       end
-           | None => is_error a
-           end
-         | _ => match a with ARows _ _ | AHist _ _ => want_commit r v t a | _ => true end   (* refusing is fine; rows must be the right ones *)
-         end
-o    if revdb_denotes r v then want_commit r v t a
-    else match (norm_base r (fst v), snd v) with
-         | (BBranch b, []) =>                         (* dirty branch: `db/branch` is the branch's working set *)
-           match branch_working r b with
-           | Some w => match assoc t (d_schema w) with
-                       | Some cols => ans_eqb a (ARows cols (rows_of t (d_data w)))
-                       | None => is_error a
-                       end
-           | None => is_error a
-           end
-         | _ => match a with ARows _ _ | AHist _ _ => want_commit r v t a | _ => true end   (* refusing is fine; rows must be the right ones *)
-         end
-l    if revdb_denotes r v then want_commit r v t a
-    else match (norm_base r (fst v), snd v) with
-         | (BBranch b, []) =>                         (* dirty branch: `db/branch` is the branch's working set *)
-           match branch_working r b with
-           | Some w => match assoc t (d_schema w) with
-                       | Some cols => ans_eqb a (ARows cols (rows_of t (d_data w)))
-                       | None => is_error a
-                       end
-           | None => is_error a
-           end
-         | _ => match a with ARows _ _ | AHist _ _ => want_commit r v t a | _ => true end   (* refusing is fine; rows must be the right ones *)
-         end
-t    if revdb_denotes r v then want_commit r v t a
-    else match (norm_base r (fst v), snd v) with
-         | (BBranch b, []) =>                         (* dirty branch: `db/branch` is the branch's working set *)
-           match branch_working r b with
-           | Some w => match assoc t (d_schema w) with
-                       | Some cols => ans_eqb a (ARows cols (rows_of t (d_data w)))
-                       | None => is_error a
-                       end
-           | None => is_error a
-           end
-         | _ => match a with ARows _ _ | AHist _ _ => want_commit r v t a | _ => true end   (* refusing is fine; rows must be the right ones *)
-         end
-_    if revdb_denotes r v then want_commit r v t a
-    else match (norm_base r (fst v), snd v) with
-         | (BBranch b, []) =>                         (* dirty branch: `db/branch` is the branch's working set *)
-           match branch_working r b with
-           | Some w => match assoc t (d_schema w) with
-                       | Some cols => ans_eqb a (ARows cols (rows_of t (d_data w)))
-                       | None => is_error a
-                       end
-           | None => is_error a
-           end
-         | _ => match a with ARows _ _ | AHist _ _ => want_commit r v t a | _ => true end   (* refusing is fine; rows must be the right ones *)
-         end
-h    if revdb_denotes r v then want_commit r v t a
-    else match (norm_base r (fst v), snd v) with
-         | (BBranch b, []) =>                         (* dirty branch: `db/branch` is the branch's working set *)
-           match branch_working r b with
-           | Some w => match assoc t (d_schema w) with
-                       | Some cols => ans_eqb a (ARows cols (rows_of t (d_data w)))
-                       | None => is_error a
-                       end
-           | None => is_error a
-           end
-         | _ => match a with ARows _ _ | AHist _ _ => want_commit r v t a | _ => true end   (* refusing is fine; rows must be the right ones *)
-         end
-i    if revdb_denotes r v then want_commit r v t a
-    else match (norm_base r (fst v), snd v) with
-         | (BBranch b, []) =>                         (* dirty branch: `db/branch` is the branch's working set *)
-           match branch_working r b with
-           | Some w => match assoc t (d_schema w) with
-                       | Some cols => ans_eqb a (ARows cols (rows_of t (d_data w)))
-                       | None => is_error a
-                       end
-           | None => is_error a
-           end
-         | _ => match a with ARows _ _ | AHist _ _ => want_commit r v t a | _ => true end   (* refusing is fine; rows must be the right ones *)
-         end
-s    if revdb_denotes r v then want_commit r v t a
-    else match (norm_base r (fst v), snd v) with
-         | (BBranch b, []) =>                         (* dirty branch: `db/branch` is the branch's working set *)
-           match branch_working r b with
-           | Some w => match assoc t (d_schema w) with
-                       | Some cols => ans_eqb a (ARows cols (rows_of t (d_data w)))
-                       | None => is_error a
-                       end
-           | None => is_error a
-           end
-         | _ => match a with ARows _ _ | AHist _ _ => want_commit r v t a | _ => true end   (* refusing is fine; rows must be the right ones *)
-         end
-t    if revdb_denotes r v then want_commit r v t a
-    else match (norm_base r (fst v), snd v) with
-         | (BBranch b, []) =>                         (* dirty branch: `db/branch` is the branch's working set *)
-           match branch_working r b with
-           | Some w => match assoc t (d_schema w) with
-                       | Some cols => ans_eqb a (ARows cols (rows_of t (d_data w)))
-                       | None => is_error a
-                       end
-           | None => is_error a
-           end
-         | _ => match a with ARows _ _ | AHist _ _ => want_commit r v t a | _ => true end   (* refusing is fine; rows must be the right ones *)
-         end
-o    if revdb_denotes r v then want_commit r v t a
-    else match (norm_base r (fst v), snd v) with
-         | (BBranch b, []) =>                         (* dirty branch: `db/branch` is the branch's working set *)
-           match branch_working r b with
-           | Some w => match assoc t (d_schema w) with
-                       | Some cols => ans_eqb a (ARows cols (rows_of t (d_data w)))
-                       | None => is_error a
-                       end
-           | None => is_error a
-           end
-         | _ => match a with ARows _ _ | AHist _ _ => want_commit r v t a | _ => true end   (* refusing is fine; rows must be the right ones *)
-         end
-r    if revdb_denotes r v then want_commit r v t a
-    else match (norm_base r (fst v), snd v) with
-         | (BBranch b, []) =>                         (* dirty branch: `db/branch` is the branch's working set *)
-           match branch_working r b with
-           | Some w => match assoc t (d_schema w) with
-                       | Some cols => ans_eqb a (ARows cols (rows_of t (d_data w)))
-                       | None => is_error a
-                       end
-           | None => is_error a
-           end
-         | _ => match a with ARows _ _ | AHist _ _ => want_commit r v t a | _ => true end   (* refusing is fine; rows must be the right ones *)
-         end
-y    if revdb_denotes r v then want_commit r v t a
-    else match (norm_base r (fst v), snd v) with
-         | (BBranch b, []) =>                         (* dirty branch: `db/branch` is the branch's working set *)
-           match branch_working r b with
-           | Some w => match assoc t (d_schema w) with
-                       | Some cols => ans_eqb a (ARows cols (rows_of t (d_data w)))
-                       | None => is_error a
-                       end
-           | None => is_error a
-           end
-         | _ => match a with ARows _ _ | AHist _ _ => want_commit r v t a | _ => true end   (* refusing is fine; rows must be the right ones *)
-         end
-_    if revdb_denotes r v then want_commit r v t a
-    else match (norm_base r (fst v), snd v) with
-         | (BBranch b, []) =>                         (* dirty branch: `db/branch` is the branch's working set *)
-           match branch_working r b with
-           | Some w => match assoc t (d_schema w) with
-                       | Some cols => ans_eqb a (ARows cols (rows_of t (d_data w)))
-                       | None => is_error a
-                       end
-           | None => is_error a
-           end
-         | _ => match a with ARows _ _ | AHist _ _ => want_commit r v t a | _ => true end   (* refusing is fine; rows must be the right ones *)
-         end
-t    if revdb_denotes r v then want_commit r v t a
-    else match (norm_base r (fst v), snd v) with
-         | (BBranch b, []) =>                         (* dirty branch: `db/branch` is the branch's working set *)
-           match branch_working r b with
-           | Some w => match assoc t (d_schema w) with
-                       | Some cols => ans_eqb a (ARows cols (rows_of t (d_data w)))
-                       | None => is_error a
-                       end
-           | None => is_error a
-           end
-         | _ => match a with ARows _ _ | AHist _ _ => want_commit r v t a | _ => true end   (* refusing is fine; rows must be the right ones *)
-         end
-     if revdb_denotes r v then want_commit r v t a
-    else match (norm_base r (fst v), snd v) with
-         | (BBranch b, []) =>                         (* dirty branch: `db/branch` is the branch's working set *)
-           match branch_working r b with
-           | Some w => match assoc t (d_schema w) with
-                       | Some cols => ans_eqb a (ARows cols (rows_of t (d_data w)))
-                       | None => is_error a
-                       end
-           | None => is_error a
-           end
-         | _ => match a with ARows _ _ | AHist _ _ => want_commit r v t a | _ => true end   (* refusing is fine; rows must be the right ones *)
-         end
-*    if revdb_denotes r v then want_commit r v t a
-    else match (norm_base r (fst v), snd v) with
-         | (BBranch b, []) =>                         (* dirty branch: `db/branch` is the branch's working set *)
-           match branch_working r b with
-           | Some w => match assoc t (d_schema w) with
-                       | Some cols => ans_eqb a (ARows cols (rows_of t (d_data w)))
-                       | None => is_error a
-                       end
-           | None => is_error a
-           end
-         | _ => match a with ARows _ _ | AHist _ _ => want_commit r v t a | _ => true end   (* refusing is fine; rows must be the right ones *)
-         end
-)    if revdb_denotes r v then want_commit r v t a
-    else match (norm_base r (fst v), snd v) with
-         | (BBranch b, []) =>                         (* dirty branch: `db/branch` is the branch's working set *)
-           match branch_working r b with
-           | Some w => match assoc t (d_schema w) with
-                       | Some cols => ans_eqb a (ARows cols (rows_of t (d_data w)))
-                       | None => is_error a
-                       end
-           | None => is_error a
-           end
-         | _ => match a with ARows _ _ | AHist _ _ => want_commit r v t a | _ => true end   (* refusing is fine; rows must be the right ones *)
-         end
-
-    if revdb_denotes r v then want_commit r v t a
-    else match (norm_base r (fst v), snd v) with
-         | (BBranch b, []) =>                         (* dirty branch: `db/branch` is the branch's working set *)
-           match branch_working r b with
-           | Some w => match assoc t (d_schema w) with
-                       | Some cols => ans_eqb a (ARows cols (rows_of t (d_data w)))
-                       | None => is_error a
-                       end
-           | None => is_error a
-           end
-         | _ => match a with ARows _ _ | AHist _ _ => want_commit r v t a | _ => true end   (* refusing is fine; rows must be the right ones *)
-         end
-
-    if revdb_denotes r v then want_commit r v t a
-    else match (norm_base r (fst v), snd v) with
-         | (BBranch b, []) =>                         (* dirty branch: `db/branch` is the branch's working set *)
-           match branch_working r b with
-           | Some w => match assoc t (d_schema w) with
-                       | Some cols => ans_eqb a (ARows cols (rows_of t (d_data w)))
-                       | None => is_error a
-                       end
-           | None => is_error a
-           end
-         | _ => match a with ARows _ _ | AHist _ _ => want_commit r v t a | _ => true end   (* refusing is fine; rows must be the right ones *)
-         end
-D    if revdb_denotes r v then want_commit r v t a
-    else match (norm_base r (fst v), snd v) with
-         | (BBranch b, []) =>                         (* dirty branch: `db/branch` is the branch's working set *)
-           match branch_working r b with
-           | Some w => match assoc t (d_schema w) with
-                       | Some cols => ans_eqb a (ARows cols (rows_of t (d_data w)))
-                       | None => is_error a
-                       end
-           | None => is_error a
-           end
-         | _ => match a with ARows _ _ | AHist _ _ => want_commit r v t a | _ => true end   (* refusing is fine; rows must be the right ones *)
-         end
-e    if revdb_denotes r v then want_commit r v t a
-    else match (norm_base r (fst v), snd v) with
-         | (BBranch b, []) =>                         (* dirty branch: `db/branch` is the branch's working set *)
-           match branch_working r b with
-           | Some w => match assoc t (d_schema w) with
-                       | Some cols => ans_eqb a (ARows cols (rows_of t (d_data w)))
-                       | None => is_error a
-                       end
-           | None => is_error a
-           end
-         | _ => match a with ARows _ _ | AHist _ _ => want_commit r v t a | _ => true end   (* refusing is fine; rows must be the right ones *)
-         end
-f    if revdb_denotes r v then want_commit r v t a
-    else match (norm_base r (fst v), snd v) with
-         | (BBranch b, []) =>                         (* dirty branch: `db/branch` is the branch's working set *)
-           match branch_working r b with
-           | Some w => match assoc t (d_schema w) with
-                       | Some cols => ans_eqb a (ARows cols (rows_of t (d_data w)))
-                       | None => is_error a
-                       end
-           | None => is_error a
-           end
-         | _ => match a with ARows _ _ | AHist _ _ => want_commit r v t a | _ => true end   (* refusing is fine; rows must be the right ones *)
-         end
-i    if revdb_denotes r v then want_commit r v t a
-    else match (norm_base r (fst v), snd v) with
-         | (BBranch b, []) =>                         (* dirty branch: `db/branch` is the branch's working set *)
-           match branch_working r b with
-           | Some w => match assoc t (d_schema w) with
-                       | Some cols => ans_eqb a (ARows cols (rows_of t (d_data w)))
-                       | None => is_error a
-                       end
-           | None => is_error a
-           end
-         | _ => match a with ARows _ _ | AHist _ _ => want_commit r v t a | _ => true end   (* refusing is fine; rows must be the right ones *)
-         end
-n    if revdb_denotes r v then want_commit r v t a
-    else match (norm_base r (fst v), snd v) with
-         | (BBranch b, []) =>                         (* dirty branch: `db/branch` is the branch's working set *)
-           match branch_working r b with
-           | Some w => match assoc t (d_schema w) with
-                       | Some cols => ans_eqb a (ARows cols (rows_of t (d_data w)))
-                       | None => is_error a
-                       end
-           | None => is_error a
-           end
-         | _ => match a with ARows _ _ | AHist _ _ => want_commit r v t a | _ => true end   (* refusing is fine; rows must be the right ones *)
-         end
-i    if revdb_denotes r v then want_commit r v t a
-    else match (norm_base r (fst v), snd v) with
-         | (BBranch b, []) =>                         (* dirty branch: `db/branch` is the branch's working set *)
-           match branch_working r b with
-           | Some w => match assoc t (d_schema w) with
-                       | Some cols => ans_eqb a (ARows cols (rows_of t (d_data w)))
-                       | None => is_error a
-                       end
-           | None => is_error a
-           end
-         | _ => match a with ARows _ _ | AHist _ _ => want_commit r v t a | _ => true end   (* refusing is fine; rows must be the right ones *)
-         end
-t    if revdb_denotes r v then want_commit r v t a
-    else match (norm_base r (fst v), snd v) with
-         | (BBranch b, []) =>                         (* dirty branch: `db/branch` is the branch's working set *)
-           match branch_working r b with
-           | Some w => match assoc t (d_schema w) with
-                       | Some cols => ans_eqb a (ARows cols (rows_of t (d_data w)))
-                       | None => is_error a
-                       end
-           | None => is_error a
-           end
-         | _ => match a with ARows _ _ | AHist _ _ => want_commit r v t a | _ => true end   (* refusing is fine; rows must be the right ones *)
-         end
-i    if revdb_denotes r v then want_commit r v t a
-    else match (norm_base r (fst v), snd v) with
-         | (BBranch b, []) =>                         (* dirty branch: `db/branch` is the branch's working set *)
-           match branch_working r b with
-           | Some w => match assoc t (d_schema w) with
-                       | Some cols => ans_eqb a (ARows cols (rows_of t (d_data w)))
-                       | None => is_error a
-                       end
-           | None => is_error a
-           end
-         | _ => match a with ARows _ _ | AHist _ _ => want_commit r v t a | _ => true end   (* refusing is fine; rows must be the right ones *)
-         end
-o    if revdb_denotes r v then want_commit r v t a
-    else match (norm_base r (fst v), snd v) with
-         | (BBranch b, []) =>                         (* dirty branch: `db/branch` is the branch's working set *)
-           match branch_working r b with
-           | Some w => match assoc t (d_schema w) with
-                       | Some cols => ans_eqb a (ARows cols (rows_of t (d_data w)))
-                       | None => is_error a
-                       end
-           | None => is_error a
-           end
-         | _ => match a with ARows _ _ | AHist _ _ => want_commit r v t a | _ => true end   (* refusing is fine; rows must be the right ones *)
-         end
-n    if revdb_denotes r v then want_commit r v t a
-    else match (norm_base r (fst v), snd v) with
-         | (BBranch b, []) =>                         (* dirty branch: `db/branch` is the branch's working set *)
-           match branch_working r b with
-           | Some w => match assoc t (d_schema w) with
-                       | Some cols => ans_eqb a (ARows cols (rows_of t (d_data w)))
-                       | None => is_error a
-                       end
-           | None => is_error a
-           end
-         | _ => match a with ARows _ _ | AHist _ _ => want_commit r v t a | _ => true end   (* refusing is fine; rows must be the right ones *)
-         end
-     if revdb_denotes r v then want_commit r v t a
-    else match (norm_base r (fst v), snd v) with
-         | (BBranch b, []) =>                         (* dirty branch: `db/branch` is the branch's working set *)
-           match branch_working r b with
-           | Some w => match assoc t (d_schema w) with
-                       | Some cols => ans_eqb a (ARows cols (rows_of t (d_data w)))
-                       | None => is_error a
-                       end
-           | None => is_error a
-           end
-         | _ => match a with ARows _ _ | AHist _ _ => want_commit r v t a | _ => true end   (* refusing is fine; rows must be the right ones *)
-         end
-i    if revdb_denotes r v then want_commit r v t a
-    else match (norm_base r (fst v), snd v) with
-         | (BBranch b, []) =>                         (* dirty branch: `db/branch` is the branch's working set *)
-           match branch_working r b with
-           | Some w => match assoc t (d_schema w) with
-                       | Some cols => ans_eqb a (ARows cols (rows_of t (d_data w)))
-                       | None => is_error a
-                       end
-           | None => is_error a
-           end
-         | _ => match a with ARows _ _ | AHist _ _ => want_commit r v t a | _ => true end   (* refusing is fine; rows must be the right ones *)
-         end
-n    if revdb_denotes r v then want_commit r v t a
-    else match (norm_base r (fst v), snd v) with
-         | (BBranch b, []) =>                         (* dirty branch: `db/branch` is the branch's working set *)
-           match branch_working r b with
-           | Some w => match assoc t (d_schema w) with
-                       | Some cols => ans_eqb a (ARows cols (rows_of t (d_data w)))
-                       | None => is_error a
-                       end
-           | None => is_error a
-           end
-         | _ => match a with ARows _ _ | AHist _ _ => want_commit r v t a | _ => true end   (* refusing is fine; rows must be the right ones *)
-         end
-p    if revdb_denotes r v then want_commit r v t a
-    else match (norm_base r (fst v), snd v) with
-         | (BBranch b, []) =>                         (* dirty branch: `db/branch` is the branch's working set *)
-           match branch_working r b with
-           | Some w => match assoc t (d_schema w) with
-                       | Some cols => ans_eqb a (ARows cols (rows_of t (d_data w)))
-                       | None => is_error a
-                       end
-           | None => is_error a
-           end
-         | _ => match a with ARows _ _ | AHist _ _ => want_commit r v t a | _ => true end   (* refusing is fine; rows must be the right ones *)
-         end
-u    if revdb_denotes r v then want_commit r v t a
-    else match (norm_base r (fst v), snd v) with
-         | (BBranch b, []) =>                         (* dirty branch: `db/branch` is the branch's working set *)
-           match branch_working r b with
-           | Some w => match assoc t (d_schema w) with
-                       | Some cols => ans_eqb a (ARows cols (rows_of t (d_data w)))
-                       | None => is_error a
-                       end
-           | None => is_error a
-           end
-         | _ => match a with ARows _ _ | AHist _ _ => want_commit r v t a | _ => true end   (* refusing is fine; rows must be the right ones *)
-         end
-t    if revdb_denotes r v then want_commit r v t a
-    else match (norm_base r (fst v), snd v) with
-         | (BBranch b, []) =>                         (* dirty branch: `db/branch` is the branch's working set *)
-           match branch_working r b with
-           | Some w => match assoc t (d_schema w) with
-                       | Some cols => ans_eqb a (ARows cols (rows_of t (d_data w)))
-                       | None => is_error a
-                       end
-           | None => is_error a
-           end
-         | _ => match a with ARows _ _ | AHist _ _ => want_commit r v t a | _ => true end   (* refusing is fine; rows must be the right ones *)
-         end
-     if revdb_denotes r v then want_commit r v t a
-    else match (norm_base r (fst v), snd v) with
-         | (BBranch b, []) =>                         (* dirty branch: `db/branch` is the branch's working set *)
-           match branch_working r b with
-           | Some w => match assoc t (d_schema w) with
-                       | Some cols => ans_eqb a (ARows cols (rows_of t (d_data w)))
-                       | None => is_error a
-                       end
-           | None => is_error a
-           end
-         | _ => match a with ARows _ _ | AHist _ _ => want_commit r v t a | _ => true end   (* refusing is fine; rows must be the right ones *)
-         end
-:    if revdb_denotes r v then want_commit r v t a
-    else match (norm_base r (fst v), snd v) with
-         | (BBranch b, []) =>                         (* dirty branch: `db/branch` is the branch's working set *)
-           match branch_working r b with
-           | Some w => match assoc t (d_schema w) with
-                       | Some cols => ans_eqb a (ARows cols (rows_of t (d_data w)))
-                       | None => is_error a
-                       end
-           | None => is_error a
-           end
-         | _ => match a with ARows _ _ | AHist _ _ => want_commit r v t a | _ => true end   (* refusing is fine; rows must be the right ones *)
-         end
-=    if revdb_denotes r v then want_commit r v t a
-    else match (norm_base r (fst v), snd v) with
-         | (BBranch b, []) =>                         (* dirty branch: `db/branch` is the branch's working set *)
-           match branch_working r b with
-           | Some w => match assoc t (d_schema w) with
-                       | Some cols => ans_eqb a (ARows cols (rows_of t (d_data w)))
-                       | None => is_error a
-                       end
-           | None => is_error a
-           end
-         | _ => match a with ARows _ _ | AHist _ _ => want_commit r v t a | _ => true end   (* refusing is fine; rows must be the right ones *)
-         end
-     if revdb_denotes r v then want_commit r v t a
-    else match (norm_base r (fst v), snd v) with
-         | (BBranch b, []) =>                         (* dirty branch: `db/branch` is the branch's working set *)
-           match branch_working r b with
-           | Some w => match assoc t (d_schema w) with
-                       | Some cols => ans_eqb a (ARows cols (rows_of t (d_data w)))
-                       | None => is_error a
-                       end
-           | None => is_error a
-           end
-         | _ => match a with ARows _ _ | AHist _ _ => want_commit r v t a | _ => true end   (* refusing is fine; rows must be the right ones *)
-         end
-(    if revdb_denotes r v then want_commit r v t a
-    else match (norm_base r (fst v), snd v) with
-         | (BBranch b, []) =>                         (* dirty branch: `db/branch` is the branch's working set *)
-           match branch_working r b with
-           | Some w => match assoc t (d_schema w) with
-                       | Some cols => ans_eqb a (ARows cols (rows_of t (d_data w)))
-                       | None => is_error a
-                       end
-           | None => is_error a
-           end
-         | _ => match a with ARows _ _ | AHist _ _ => want_commit r v t a | _ => true end   (* refusing is fine; rows must be the right ones *)
-         end
-r    if revdb_denotes r v then want_commit r v t a
-    else match (norm_base r (fst v), snd v) with
-         | (BBranch b, []) =>                         (* dirty branch: `db/branch` is the branch's working set *)
-           match branch_working r b with
-           | Some w => match assoc t (d_schema w) with
-                       | Some cols => ans_eqb a (ARows cols (rows_of t (d_data w)))
-                       | None => is_error a
-                       end
-           | None => is_error a
-           end
-         | _ => match a with ARows _ _ | AHist _ _ => want_commit r v t a | _ => true end   (* refusing is fine; rows must be the right ones *)
-         end
-e    if revdb_denotes r v then want_commit r v t a
-    else match (norm_base r (fst v), snd v) with
-         | (BBranch b, []) =>                         (* dirty branch: `db/branch` is the branch's working set *)
-           match branch_working r b with
-           | Some w => match assoc t (d_schema w) with
-                       | Some cols => ans_eqb a (ARows cols (rows_of t (d_data w)))
-                       | None => is_error a
-                       end
-           | None => is_error a
-           end
-         | _ => match a with ARows _ _ | AHist _ _ => want_commit r v t a | _ => true end   (* refusing is fine; rows must be the right ones *)
-         end
-p    if revdb_denotes r v then want_commit r v t a
-    else match (norm_base r (fst v), snd v) with
-         | (BBranch b, []) =>                         (* dirty branch: `db/branch` is the branch's working set *)
-           match branch_working r b with
-           | Some w => match assoc t (d_schema w) with
-                       | Some cols => ans_eqb a (ARows cols (rows_of t (d_data w)))
-                       | None => is_error a
-                       end
-           | None => is_error a
-           end
-         | _ => match a with ARows _ _ | AHist _ _ => want_commit r v t a | _ => true end   (* refusing is fine; rows must be the right ones *)
-         end
-o    if revdb_denotes r v then want_commit r v t a
-    else match (norm_base r (fst v), snd v) with
-         | (BBranch b, []) =>                         (* dirty branch: `db/branch` is the branch's working set *)
-           match branch_working r b with
-           | Some w => match assoc t (d_schema w) with
-                       | Some cols => ans_eqb a (ARows cols (rows_of t (d_data w)))
-                       | None => is_error a
-                       end
-           | None => is_error a
-           end
-         | _ => match a with ARows _ _ | AHist _ _ => want_commit r v t a | _ => true end   (* refusing is fine; rows must be the right ones *)
-         end
-     if revdb_denotes r v then want_commit r v t a
-    else match (norm_base r (fst v), snd v) with
-         | (BBranch b, []) =>                         (* dirty branch: `db/branch` is the branch's working set *)
-           match branch_working r b with
-           | Some w => match assoc t (d_schema w) with
-                       | Some cols => ans_eqb a (ARows cols (rows_of t (d_data w)))
-                       | None => is_error a
-                       end
-           | None => is_error a
-           end
-         | _ => match a with ARows _ _ | AHist _ _ => want_commit r v t a | _ => true end   (* refusing is fine; rows must be the right ones *)
-         end
-*    if revdb_denotes r v then want_commit r v t a
-    else match (norm_base r (fst v), snd v) with
-         | (BBranch b, []) =>                         (* dirty branch: `db/branch` is the branch's working set *)
-           match branch_working r b with
-           | Some w => match assoc t (d_schema w) with
-                       | Some cols => ans_eqb a (ARows cols (rows_of t (d_data w)))
-                       | None => is_error a
-                       end
-           | None => is_error a
-           end
-         | _ => match a with ARows _ _ | AHist _ _ => want_commit r v t a | _ => true end   (* refusing is fine; rows must be the right ones *)
-         end
-     if revdb_denotes r v then want_commit r v t a
-    else match (norm_base r (fst v), snd v) with
-         | (BBranch b, []) =>                         (* dirty branch: `db/branch` is the branch's working set *)
-           match branch_working r b with
-           | Some w => match assoc t (d_schema w) with
-                       | Some cols => ans_eqb a (ARows cols (rows_of t (d_data w)))
-                       | None => is_error a
-                       end
-           | None => is_error a
-           end
-         | _ => match a with ARows _ _ | AHist _ _ => want_commit r v t a | _ => true end   (* refusing is fine; rows must be the right ones *)
-         end
-l    if revdb_denotes r v then want_commit r v t a
-    else match (norm_base r (fst v), snd v) with
-         | (BBranch b, []) =>                         (* dirty branch: `db/branch` is the branch's working set *)
-           match branch_working r b with
-           | Some w => match assoc t (d_schema w) with
-                       | Some cols => ans_eqb a (ARows cols (rows_of t (d_data w)))
-                       | None => is_error a
-                       end
-           | None => is_error a
-           end
-         | _ => match a with ARows _ _ | AHist _ _ => want_commit r v t a | _ => true end   (* refusing is fine; rows must be the right ones *)
-         end
-i    if revdb_denotes r v then want_commit r v t a
-    else match (norm_base r (fst v), snd v) with
-         | (BBranch b, []) =>                         (* dirty branch: `db/branch` is the branch's working set *)
-           match branch_working r b with
-           | Some w => match assoc t (d_schema w) with
-                       | Some cols => ans_eqb a (ARows cols (rows_of t (d_data w)))
-                       | None => is_error a
-                       end
-           | None => is_error a
-           end
-         | _ => match a with ARows _ _ | AHist _ _ => want_commit r v t a | _ => true end   (* refusing is fine; rows must be the right ones *)
-         end
-s    if revdb_denotes r v then want_commit r v t a
-    else match (norm_base r (fst v), snd v) with
-         | (BBranch b, []) =>                         (* dirty branch: `db/branch` is the branch's working set *)
-           match branch_working r b with
-           | Some w => match assoc t (d_schema w) with
-                       | Some cols => ans_eqb a (ARows cols (rows_of t (d_data w)))
-                       | None => is_error a
-                       end
-           | None => is_error a
-           end
-         | _ => match a with ARows _ _ | AHist _ _ => want_commit r v t a | _ => true end   (* refusing is fine; rows must be the right ones *)
-         end
-t    if revdb_denotes r v then want_commit r v t a
-    else match (norm_base r (fst v), snd v) with
-         | (BBranch b, []) =>                         (* dirty branch: `db/branch` is the branch's working set *)
-           match branch_working r b with
-           | Some w => match assoc t (d_schema w) with
-                       | Some cols => ans_eqb a (ARows cols (rows_of t (d_data w)))
-                       | None => is_error a
-                       end
-           | None => is_error a
-           end
-         | _ => match a with ARows _ _ | AHist _ _ => want_commit r v t a | _ => true end   (* refusing is fine; rows must be the right ones *)
-         end
-     if revdb_denotes r v then want_commit r v t a
-    else match (norm_base r (fst v), snd v) with
-         | (BBranch b, []) =>                         (* dirty branch: `db/branch` is the branch's working set *)
-           match branch_working r b with
-           | Some w => match assoc t (d_schema w) with
-                       | Some cols => ans_eqb a (ARows cols (rows_of t (d_data w)))
-                       | None => is_error a
-                       end
-           | None => is_error a
-           end
-         | _ => match a with ARows _ _ | AHist _ _ => want_commit r v t a | _ => true end   (* refusing is fine; rows must be the right ones *)
-         end
-q    if revdb_denotes r v then want_commit r v t a
-    else match (norm_base r (fst v), snd v) with
-         | (BBranch b, []) =>                         (* dirty branch: `db/branch` is the branch's working set *)
-           match branch_working r b with
-           | Some w => match assoc t (d_schema w) with
-                       | Some cols => ans_eqb a (ARows cols (rows_of t (d_data w)))
-                       | None => is_error a
-                       end
-           | None => is_error a
-           end
-         | _ => match a with ARows _ _ | AHist _ _ => want_commit r v t a | _ => true end   (* refusing is fine; rows must be the right ones *)
-         end
-u    if revdb_denotes r v then want_commit r v t a
-    else match (norm_base r (fst v), snd v) with
-         | (BBranch b, []) =>                         (* dirty branch: `db/branch` is the branch's working set *)
-           match branch_working r b with
-           | Some w => match assoc t (d_schema w) with
-                       | Some cols => ans_eqb a (ARows cols (rows_of t (d_data w)))
-                       | None => is_error a
-                       end
-           | None => is_error a
-           end
-         | _ => match a with ARows _ _ | AHist _ _ => want_commit r v t a | _ => true end   (* refusing is fine; rows must be the right ones *)
-         end
-e    if revdb_denotes r v then want_commit r v t a
-    else match (norm_base r (fst v), snd v) with
-         | (BBranch b, []) =>                         (* dirty branch: `db/branch` is the branch's working set *)
-           match branch_working r b with
-           | Some w => match assoc t (d_schema w) with
-                       | Some cols => ans_eqb a (ARows cols (rows_of t (d_data w)))
-                       | None => is_error a
-                       end
-           | None => is_error a
-           end
-         | _ => match a with ARows _ _ | AHist _ _ => want_commit r v t a | _ => true end   (* refusing is fine; rows must be the right ones *)
-         end
-r    if revdb_denotes r v then want_commit r v t a
-    else match (norm_base r (fst v), snd v) with
-         | (BBranch b, []) =>                         (* dirty branch: `db/branch` is the branch's working set *)
-           match branch_working r b with
-           | Some w => match assoc t (d_schema w) with
-                       | Some cols => ans_eqb a (ARows cols (rows_of t (d_data w)))
-                       | None => is_error a
-                       end
-           | None => is_error a
-           end
-         | _ => match a with ARows _ _ | AHist _ _ => want_commit r v t a | _ => true end   (* refusing is fine; rows must be the right ones *)
-         end
-y    if revdb_denotes r v then want_commit r v t a
-    else match (norm_base r (fst v), snd v) with
-         | (BBranch b, []) =>                         (* dirty branch: `db/branch` is the branch's working set *)
-           match branch_working r b with
-           | Some w => match assoc t (d_schema w) with
-                       | Some cols => ans_eqb a (ARows cols (rows_of t (d_data w)))
-                       | None => is_error a
-                       end
-           | None => is_error a
-           end
-         | _ => match a with ARows _ _ | AHist _ _ => want_commit r v t a | _ => true end   (* refusing is fine; rows must be the right ones *)
-         end
-)    if revdb_denotes r v then want_commit r v t a
-    else match (norm_base r (fst v), snd v) with
-         | (BBranch b, []) =>                         (* dirty branch: `db/branch` is the branch's working set *)
-           match branch_working r b with
-           | Some w => match assoc t (d_schema w) with
-                       | Some cols => ans_eqb a (ARows cols (rows_of t (d_data w)))
-                       | None => is_error a
-                       end
-           | None => is_error a
-           end
-         | _ => match a with ARows _ _ | AHist _ _ => want_commit r v t a | _ => true end   (* refusing is fine; rows must be the right ones *)
-         end
-%    if revdb_denotes r v then want_commit r v t a
-    else match (norm_base r (fst v), snd v) with
-         | (BBranch b, []) =>                         (* dirty branch: `db/branch` is the branch's working set *)
-           match branch_working r b with
-           | Some w => match assoc t (d_schema w) with
-                       | Some cols => ans_eqb a (ARows cols (rows_of t (d_data w)))
-                       | None => is_error a
-                       end
-           | None => is_error a
-           end
-         | _ => match a with ARows _ _ | AHist _ _ => want_commit r v t a | _ => true end   (* refusing is fine; rows must be the right ones *)
-         end
-t    if revdb_denotes r v then want_commit r v t a
-    else match (norm_base r (fst v), snd v) with
-         | (BBranch b, []) =>                         (* dirty branch: `db/branch` is the branch's working set *)
-           match branch_working r b with
-           | Some w => match assoc t (d_schema w) with
-                       | Some cols => ans_eqb a (ARows cols (rows_of t (d_data w)))
-                       | None => is_error a
-                       end
-           | None => is_error a
-           end
-         | _ => match a with ARows _ _ | AHist _ _ => want_commit r v t a | _ => true end   (* refusing is fine; rows must be the right ones *)
-         end
-y    if revdb_denotes r v then want_commit r v t a
-    else match (norm_base r (fst v), snd v) with
-         | (BBranch b, []) =>                         (* dirty branch: `db/branch` is the branch's working set *)
-           match branch_working r b with
-           | Some w => match assoc t (d_schema w) with
-                       | Some cols => ans_eqb a (ARows cols (rows_of t (d_data w)))
-                       | None => is_error a
-                       end
-           | None => is_error a
-           end
-         | _ => match a with ARows _ _ | AHist _ _ => want_commit r v t a | _ => true end   (* refusing is fine; rows must be the right ones *)
-         end
-p    if revdb_denotes r v then want_commit r v t a
-    else match (norm_base r (fst v), snd v) with
-         | (BBranch b, []) =>                         (* dirty branch: `db/branch` is the branch's working set *)
-           match branch_working r b with
-           | Some w => match assoc t (d_schema w) with
-                       | Some cols => ans_eqb a (ARows cols (rows_of t (d_data w)))
-                       | None => is_error a
-                       end
-           | None => is_error a
-           end
-         | _ => match a with ARows _ _ | AHist _ _ => want_commit r v t a | _ => true end   (* refusing is fine; rows must be the right ones *)
-         end
-e    if revdb_denotes r v then want_commit r v t a
-    else match (norm_base r (fst v), snd v) with
-         | (BBranch b, []) =>                         (* dirty branch: `db/branch` is the branch's working set *)
-           match branch_working r b with
-           | Some w => match assoc t (d_schema w) with
-                       | Some cols => ans_eqb a (ARows cols (rows_of t (d_data w)))
-                       | None => is_error a
-                       end
-           | None => is_error a
-           end
-         | _ => match a with ARows _ _ | AHist _ _ => want_commit r v t a | _ => true end   (* refusing is fine; rows must be the right ones *)
-         end
-.    if revdb_denotes r v then want_commit r v t a
-    else match (norm_base r (fst v), snd v) with
-         | (BBranch b, []) =>                         (* dirty branch: `db/branch` is the branch's working set *)
-           match branch_working r b with
-           | Some w => match assoc t (d_schema w) with
-                       | Some cols => ans_eqb a (ARows cols (rows_of t (d_data w)))
-                       | None => is_error a
-                       end
-           | None => is_error a
-           end
-         | _ => match a with ARows _ _ | AHist _ _ => want_commit r v t a | _ => true end   (* refusing is fine; rows must be the right ones *)
-         end
-
-    if revdb_denotes r v then want_commit r v t a
-    else match (norm_base r (fst v), snd v) with
-         | (BBranch b, []) =>                         (* dirty branch: `db/branch` is the branch's working set *)
-           match branch_working r b with
-           | Some w => match assoc t (d_schema w) with
-                       | Some cols => ans_eqb a (ARows cols (rows_of t (d_data w)))
-                       | None => is_error a
-                       end
-           | None => is_error a
-           end
-         | _ => match a with ARows _ _ | AHist _ _ => want_commit r v t a | _ => true end   (* refusing is fine; rows must be the right ones *)
-         end
-D    if revdb_denotes r v then want_commit r v t a
-    else match (norm_base r (fst v), snd v) with
-         | (BBranch b, []) =>                         (* dirty branch: `db/branch` is the branch's working set *)
-           match branch_working r b with
-           | Some w => match assoc t (d_schema w) with
-                       | Some cols => ans_eqb a (ARows cols (rows_of t (d_data w)))
-                       | None => is_error a
-                       end
-           | None => is_error a
-           end
-         | _ => match a with ARows _ _ | AHist _ _ => want_commit r v t a | _ => true end   (* refusing is fine; rows must be the right ones *)
-         end
-e    if revdb_denotes r v then want_commit r v t a
-    else match (norm_base r (fst v), snd v) with
-         | (BBranch b, []) =>                         (* dirty branch: `db/branch` is the branch's working set *)
-           match branch_working r b with
-           | Some w => match assoc t (d_schema w) with
-                       | Some cols => ans_eqb a (ARows cols (rows_of t (d_data w)))
-                       | None => is_error a
-                       end
-           | None => is_error a
-           end
-         | _ => match a with ARows _ _ | AHist _ _ => want_commit r v t a | _ => true end   (* refusing is fine; rows must be the right ones *)
-         end
-f    if revdb_denotes r v then want_commit r v t a
-    else match (norm_base r (fst v), snd v) with
-         | (BBranch b, []) =>                         (* dirty branch: `db/branch` is the branch's working set *)
-           match branch_working r b with
-           | Some w => match assoc t (d_schema w) with
-                       | Some cols => ans_eqb a (ARows cols (rows_of t (d_data w)))
-                       | None => is_error a
-                       end
-           | None => is_error a
-           end
-         | _ => match a with ARows _ _ | AHist _ _ => want_commit r v t a | _ => true end   (* refusing is fine; rows must be the right ones *)
-         end
-i    if revdb_denotes r v then want_commit r v t a
-    else match (norm_base r (fst v), snd v) with
-         | (BBranch b, []) =>                         (* dirty branch: `db/branch` is the branch's working set *)
-           match branch_working r b with
-           | Some w => match assoc t (d_schema w) with
-                       | Some cols => ans_eqb a (ARows cols (rows_of t (d_data w)))
-                       | None => is_error a
-                       end
-           | None => is_error a
-           end
-         | _ => match a with ARows _ _ | AHist _ _ => want_commit r v t a | _ => true end   (* refusing is fine; rows must be the right ones *)
-         end
-n    if revdb_denotes r v then want_commit r v t a
-    else match (norm_base r (fst v), snd v) with
-         | (BBranch b, []) =>                         (* dirty branch: `db/branch` is the branch's working set *)
-           match branch_working r b with
-           | Some w => match assoc t (d_schema w) with
-                       | Some cols => ans_eqb a (ARows cols (rows_of t (d_data w)))
-                       | None => is_error a
-                       end
-           | None => is_error a
-           end
-         | _ => match a with ARows _ _ | AHist _ _ => want_commit r v t a | _ => true end   (* refusing is fine; rows must be the right ones *)
-         end
-i    if revdb_denotes r v then want_commit r v t a
-    else match (norm_base r (fst v), snd v) with
-         | (BBranch b, []) =>                         (* dirty branch: `db/branch` is the branch's working set *)
-           match branch_working r b with
-           | Some w => match assoc t (d_schema w) with
-                       | Some cols => ans_eqb a (ARows cols (rows_of t (d_data w)))
-                       | None => is_error a
-                       end
-           | None => is_error a
-           end
-         | _ => match a with ARows _ _ | AHist _ _ => want_commit r v t a | _ => true end   (* refusing is fine; rows must be the right ones *)
-         end
-t    if revdb_denotes r v then want_commit r v t a
-    else match (norm_base r (fst v), snd v) with
-         | (BBranch b, []) =>                         (* dirty branch: `db/branch` is the branch's working set *)
-           match branch_working r b with
-           | Some w => match assoc t (d_schema w) with
-                       | Some cols => ans_eqb a (ARows cols (rows_of t (d_data w)))
-                       | None => is_error a
-                       end
-           | None => is_error a
-           end
-         | _ => match a with ARows _ _ | AHist _ _ => want_commit r v t a | _ => true end   (* refusing is fine; rows must be the right ones *)
-         end
-i    if revdb_denotes r v then want_commit r v t a
-    else match (norm_base r (fst v), snd v) with
-         | (BBranch b, []) =>                         (* dirty branch: `db/branch` is the branch's working set *)
-           match branch_working r b with
-           | Some w => match assoc t (d_schema w) with
-                       | Some cols => ans_eqb a (ARows cols (rows_of t (d_data w)))
-                       | None => is_error a
-                       end
-           | None => is_error a
-           end
-         | _ => match a with ARows _ _ | AHist _ _ => want_commit r v t a | _ => true end   (* refusing is fine; rows must be the right ones *)
-         end
-o    if revdb_denotes r v then want_commit r v t a
-    else match (norm_base r (fst v), snd v) with
-         | (BBranch b, []) =>                         (* dirty branch: `db/branch` is the branch's working set *)
-           match branch_working r b with
-           | Some w => match assoc t (d_schema w) with
-                       | Some cols => ans_eqb a (ARows cols (rows_of t (d_data w)))
-                       | None => is_error a
-                       end
-           | None => is_error a
-           end
-         | _ => match a with ARows _ _ | AHist _ _ => want_commit r v t a | _ => true end   (* refusing is fine; rows must be the right ones *)
-         end
-n    if revdb_denotes r v then want_commit r v t a
-    else match (norm_base r (fst v), snd v) with
-         | (BBranch b, []) =>                         (* dirty branch: `db/branch` is the branch's working set *)
-           match branch_working r b with
-           | Some w => match assoc t (d_schema w) with
-                       | Some cols => ans_eqb a (ARows cols (rows_of t (d_data w)))
-                       | None => is_error a
-                       end
-           | None => is_error a
-           end
-         | _ => match a with ARows _ _ | AHist _ _ => want_commit r v t a | _ => true end   (* refusing is fine; rows must be the right ones *)
-         end
-     if revdb_denotes r v then want_commit r v t a
-    else match (norm_base r (fst v), snd v) with
-         | (BBranch b, []) =>                         (* dirty branch: `db/branch` is the branch's working set *)
-           match branch_working r b with
-           | Some w => match assoc t (d_schema w) with
-                       | Some cols => ans_eqb a (ARows cols (rows_of t (d_data w)))
-                       | None => is_error a
-                       end
-           | None => is_error a
-           end
-         | _ => match a with ARows _ _ | AHist _ _ => want_commit r v t a | _ => true end   (* refusing is fine; rows must be the right ones *)
-         end
-o    if revdb_denotes r v then want_commit r v t a
-    else match (norm_base r (fst v), snd v) with
-         | (BBranch b, []) =>                         (* dirty branch: `db/branch` is the branch's working set *)
-           match branch_working r b with
-           | Some w => match assoc t (d_schema w) with
-                       | Some cols => ans_eqb a (ARows cols (rows_of t (d_data w)))
-                       | None => is_error a
-                       end
-           | None => is_error a
-           end
-         | _ => match a with ARows _ _ | AHist _ _ => want_commit r v t a | _ => true end   (* refusing is fine; rows must be the right ones *)
-         end
-b    if revdb_denotes r v then want_commit r v t a
-    else match (norm_base r (fst v), snd v) with
-         | (BBranch b, []) =>                         (* dirty branch: `db/branch` is the branch's working set *)
-           match branch_working r b with
-           | Some w => match assoc t (d_schema w) with
-                       | Some cols => ans_eqb a (ARows cols (rows_of t (d_data w)))
-                       | None => is_error a
-                       end
-           | None => is_error a
-           end
-         | _ => match a with ARows _ _ | AHist _ _ => want_commit r v t a | _ => true end   (* refusing is fine; rows must be the right ones *)
-         end
-s    if revdb_denotes r v then want_commit r v t a
-    else match (norm_base r (fst v), snd v) with
-         | (BBranch b, []) =>                         (* dirty branch: `db/branch` is the branch's working set *)
-           match branch_working r b with
-           | Some w => match assoc t (d_schema w) with
-                       | Some cols => ans_eqb a (ARows cols (rows_of t (d_data w)))
-                       | None => is_error a
-                       end
-           | None => is_error a
-           end
-         | _ => match a with ARows _ _ | AHist _ _ => want_commit r v t a | _ => true end   (* refusing is fine; rows must be the right ones *)
-         end
-     if revdb_denotes r v then want_commit r v t a
-    else match (norm_base r (fst v), snd v) with
-         | (BBranch b, []) =>                         (* dirty branch: `db/branch` is the branch's working set *)
-           match branch_working r b with
-           | Some w => match assoc t (d_schema w) with
-                       | Some cols => ans_eqb a (ARows cols (rows_of t (d_data w)))
-                       | None => is_error a
-                       end
-           | None => is_error a
-           end
-         | _ => match a with ARows _ _ | AHist _ _ => want_commit r v t a | _ => true end   (* refusing is fine; rows must be the right ones *)
-         end
-:    if revdb_denotes r v then want_commit r v t a
-    else match (norm_base r (fst v), snd v) with
-         | (BBranch b, []) =>                         (* dirty branch: `db/branch` is the branch's working set *)
-           match branch_working r b with
-           | Some w => match assoc t (d_schema w) with
-                       | Some cols => ans_eqb a (ARows cols (rows_of t (d_data w)))
-                       | None => is_error a
-                       end
-           | None => is_error a
-           end
-         | _ => match a with ARows _ _ | AHist _ _ => want_commit r v t a | _ => true end   (* refusing is fine; rows must be the right ones *)
-         end
-=    if revdb_denotes r v then want_commit r v t a
-    else match (norm_base r (fst v), snd v) with
-         | (BBranch b, []) =>                         (* dirty branch: `db/branch` is the branch's working set *)
-           match branch_working r b with
-           | Some w => match assoc t (d_schema w) with
-                       | Some cols => ans_eqb a (ARows cols (rows_of t (d_data w)))
-                       | None => is_error a
-                       end
-           | None => is_error a
-           end
-         | _ => match a with ARows _ _ | AHist _ _ => want_commit r v t a | _ => true end   (* refusing is fine; rows must be the right ones *)
-         end
-     if revdb_denotes r v then want_commit r v t a
-    else match (norm_base r (fst v), snd v) with
-         | (BBranch b, []) =>                         (* dirty branch: `db/branch` is the branch's working set *)
-           match branch_working r b with
-           | Some w => match assoc t (d_schema w) with
-                       | Some cols => ans_eqb a (ARows cols (rows_of t (d_data w)))
-                       | None => is_error a
-                       end
-           | None => is_error a
-           end
-         | _ => match a with ARows _ _ | AHist _ _ => want_commit r v t a | _ => true end   (* refusing is fine; rows must be the right ones *)
-         end
-l    if revdb_denotes r v then want_commit r v t a
-    else match (norm_base r (fst v), snd v) with
-         | (BBranch b, []) =>                         (* dirty branch: `db/branch` is the branch's working set *)
-           match branch_working r b with
-           | Some w => match assoc t (d_schema w) with
-                       | Some cols => ans_eqb a (ARows cols (rows_of t (d_data w)))
-                       | None => is_error a
-                       end
-           | None => is_error a
-           end
-         | _ => match a with ARows _ _ | AHist _ _ => want_commit r v t a | _ => true end   (* refusing is fine; rows must be the right ones *)
-         end
-i    if revdb_denotes r v then want_commit r v t a
-    else match (norm_base r (fst v), snd v) with
-         | (BBranch b, []) =>                         (* dirty branch: `db/branch` is the branch's working set *)
-           match branch_working r b with
-           | Some w => match assoc t (d_schema w) with
-                       | Some cols => ans_eqb a (ARows cols (rows_of t (d_data w)))
-                       | None => is_error a
-                       end
-           | None => is_error a
-           end
-         | _ => match a with ARows _ _ | AHist _ _ => want_commit r v t a | _ => true end   (* refusing is fine; rows must be the right ones *)
-         end
-s    if revdb_denotes r v then want_commit r v t a
-    else match (norm_base r (fst v), snd v) with
-         | (BBranch b, []) =>                         (* dirty branch: `db/branch` is the branch's working set *)
-           match branch_working r b with
-           | Some w => match assoc t (d_schema w) with
-                       | Some cols => ans_eqb a (ARows cols (rows_of t (d_data w)))
-                       | None => is_error a
-                       end
-           | None => is_error a
-           end
-         | _ => match a with ARows _ _ | AHist _ _ => want_commit r v t a | _ => true end   (* refusing is fine; rows must be the right ones *)
-         end
-t    if revdb_denotes r v then want_commit r v t a
-    else match (norm_base r (fst v), snd v) with
-         | (BBranch b, []) =>                         (* dirty branch: `db/branch` is the branch's working set *)
-           match branch_working r b with
-           | Some w => match assoc t (d_schema w) with
-                       | Some cols => ans_eqb a (ARows cols (rows_of t (d_data w)))
-                       | None => is_error a
-                       end
-           | None => is_error a
-           end
-         | _ => match a with ARows _ _ | AHist _ _ => want_commit r v t a | _ => true end   (* refusing is fine; rows must be the right ones *)
-         end
-     if revdb_denotes r v then want_commit r v t a
-    else match (norm_base r (fst v), snd v) with
-         | (BBranch b, []) =>                         (* dirty branch: `db/branch` is the branch's working set *)
-           match branch_working r b with
-           | Some w => match assoc t (d_schema w) with
-                       | Some cols => ans_eqb a (ARows cols (rows_of t (d_data w)))
-                       | None => is_error a
-                       end
-           | None => is_error a
-           end
-         | _ => match a with ARows _ _ | AHist _ _ => want_commit r v t a | _ => true end   (* refusing is fine; rows must be the right ones *)
-         end
-a    if revdb_denotes r v then want_commit r v t a
-    else match (norm_base r (fst v), snd v) with
-         | (BBranch b, []) =>                         (* dirty branch: `db/branch` is the branch's working set *)
-           match branch_working r b with
-           | Some w => match assoc t (d_schema w) with
-                       | Some cols => ans_eqb a (ARows cols (rows_of t (d_data w)))
-                       | None => is_error a
-                       end
-           | None => is_error a
-           end
-         | _ => match a with ARows _ _ | AHist _ _ => want_commit r v t a | _ => true end   (* refusing is fine; rows must be the right ones *)
-         end
-n    if revdb_denotes r v then want_commit r v t a
-    else match (norm_base r (fst v), snd v) with
-         | (BBranch b, []) =>                         (* dirty branch: `db/branch` is the branch's working set *)
-           match branch_working r b with
-           | Some w => match assoc t (d_schema w) with
-                       | Some cols => ans_eqb a (ARows cols (rows_of t (d_data w)))
-                       | None => is_error a
-                       end
-           | None => is_error a
-           end
-         | _ => match a with ARows _ _ | AHist _ _ => want_commit r v t a | _ => true end   (* refusing is fine; rows must be the right ones *)
-         end
-s    if revdb_denotes r v then want_commit r v t a
-    else match (norm_base r (fst v), snd v) with
-         | (BBranch b, []) =>                         (* dirty branch: `db/branch` is the branch's working set *)
-           match branch_working r b with
-           | Some w => match assoc t (d_schema w) with
-                       | Some cols => ans_eqb a (ARows cols (rows_of t (d_data w)))
-                       | None => is_error a
-                       end
-           | None => is_error a
-           end
-         | _ => match a with ARows _ _ | AHist _ _ => want_commit r v t a | _ => true end   (* refusing is fine; rows must be the right ones *)
-         end
-.    if revdb_denotes r v then want_commit r v t a
-    else match (norm_base r (fst v), snd v) with
-         | (BBranch b, []) =>                         (* dirty branch: `db/branch` is the branch's working set *)
-           match branch_working r b with
-           | Some w => match assoc t (d_schema w) with
-                       | Some cols => ans_eqb a (ARows cols (rows_of t (d_data w)))
-                       | None => is_error a
-                       end
-           | None => is_error a
-           end
-         | _ => match a with ARows _ _ | AHist _ _ => want_commit r v t a | _ => true end   (* refusing is fine; rows must be the right ones *)
-         end
-
-    if revdb_denotes r v then want_commit r v t a
-    else match (norm_base r (fst v), snd v) with
-         | (BBranch b, []) =>                         (* dirty branch: `db/branch` is the branch's working set *)
-           match branch_working r b with
-           | Some w => match assoc t (d_schema w) with
-                       | Some cols => ans_eqb a (ARows cols (rows_of t (d_data w)))
-                       | None => is_error a
-                       end
-           | None => is_error a
-           end
-         | _ => match a with ARows _ _ | AHist _ _ => want_commit r v t a | _ => true end   (* refusing is fine; rows must be the right ones *)
-         end
-D    if revdb_denotes r v then want_commit r v t a
-    else match (norm_base r (fst v), snd v) with
-         | (BBranch b, []) =>                         (* dirty branch: `db/branch` is the branch's working set *)
-           match branch_working r b with
-           | Some w => match assoc t (d_schema w) with
-                       | Some cols => ans_eqb a (ARows cols (rows_of t (d_data w)))
-                       | None => is_error a
-                       end
-           | None => is_error a
-           end
-         | _ => match a with ARows _ _ | AHist _ _ => want_commit r v t a | _ => true end   (* refusing is fine; rows must be the right ones *)
-         end
-e    if revdb_denotes r v then want_commit r v t a
-    else match (norm_base r (fst v), snd v) with
-         | (BBranch b, []) =>                         (* dirty branch: `db/branch` is the branch's working set *)
-           match branch_working r b with
-           | Some w => match assoc t (d_schema w) with
-                       | Some cols => ans_eqb a (ARows cols (rows_of t (d_data w)))
-                       | None => is_error a
-                       end
-           | None => is_error a
-           end
-         | _ => match a with ARows _ _ | AHist _ _ => want_commit r v t a | _ => true end   (* refusing is fine; rows must be the right ones *)
-         end
-f    if revdb_denotes r v then want_commit r v t a
-    else match (norm_base r (fst v), snd v) with
-         | (BBranch b, []) =>                         (* dirty branch: `db/branch` is the branch's working set *)
-           match branch_working r b with
-           | Some w => match assoc t (d_schema w) with
-                       | Some cols => ans_eqb a (ARows cols (rows_of t (d_data w)))
-                       | None => is_error a
-                       end
-           | None => is_error a
-           end
-         | _ => match a with ARows _ _ | AHist _ _ => want_commit r v t a | _ => true end   (* refusing is fine; rows must be the right ones *)
-         end
-i    if revdb_denotes r v then want_commit r v t a
-    else match (norm_base r (fst v), snd v) with
-         | (BBranch b, []) =>                         (* dirty branch: `db/branch` is the branch's working set *)
-           match branch_working r b with
-           | Some w => match assoc t (d_schema w) with
-                       | Some cols => ans_eqb a (ARows cols (rows_of t (d_data w)))
-                       | None => is_error a
-                       end
-           | None => is_error a
-           end
-         | _ => match a with ARows _ _ | AHist _ _ => want_commit r v t a | _ => true end   (* refusing is fine; rows must be the right ones *)
-         end
-n    if revdb_denotes r v then want_commit r v t a
-    else match (norm_base r (fst v), snd v) with
-         | (BBranch b, []) =>                         (* dirty branch: `db/branch` is the branch's working set *)
-           match branch_working r b with
-           | Some w => match assoc t (d_schema w) with
-                       | Some cols => ans_eqb a (ARows cols (rows_of t (d_data w)))
-                       | None => is_error a
-                       end
-           | None => is_error a
-           end
-         | _ => match a with ARows _ _ | AHist _ _ => want_commit r v t a | _ => true end   (* refusing is fine; rows must be the right ones *)
-         end
-i    if revdb_denotes r v then want_commit r v t a
-    else match (norm_base r (fst v), snd v) with
-         | (BBranch b, []) =>                         (* dirty branch: `db/branch` is the branch's working set *)
-           match branch_working r b with
-           | Some w => match assoc t (d_schema w) with
-                       | Some cols => ans_eqb a (ARows cols (rows_of t (d_data w)))
-                       | None => is_error a
-                       end
-           | None => is_error a
-           end
-         | _ => match a with ARows _ _ | AHist _ _ => want_commit r v t a | _ => true end   (* refusing is fine; rows must be the right ones *)
-         end
-t    if revdb_denotes r v then want_commit r v t a
-    else match (norm_base r (fst v), snd v) with
-         | (BBranch b, []) =>                         (* dirty branch: `db/branch` is the branch's working set *)
-           match branch_working r b with
-           | Some w => match assoc t (d_schema w) with
-                       | Some cols => ans_eqb a (ARows cols (rows_of t (d_data w)))
-                       | None => is_error a
-                       end
-           | None => is_error a
-           end
-         | _ => match a with ARows _ _ | AHist _ _ => want_commit r v t a | _ => true end   (* refusing is fine; rows must be the right ones *)
-         end
-i    if revdb_denotes r v then want_commit r v t a
-    else match (norm_base r (fst v), snd v) with
-         | (BBranch b, []) =>                         (* dirty branch: `db/branch` is the branch's working set *)
-           match branch_working r b with
-           | Some w => match assoc t (d_schema w) with
-                       | Some cols => ans_eqb a (ARows cols (rows_of t (d_data w)))
-                       | None => is_error a
-                       end
-           | None => is_error a
-           end
-         | _ => match a with ARows _ _ | AHist _ _ => want_commit r v t a | _ => true end   (* refusing is fine; rows must be the right ones *)
-         end
-o    if revdb_denotes r v then want_commit r v t a
-    else match (norm_base r (fst v), snd v) with
-         | (BBranch b, []) =>                         (* dirty branch: `db/branch` is the branch's working set *)
-           match branch_working r b with
-           | Some w => match assoc t (d_schema w) with
-                       | Some cols => ans_eqb a (ARows cols (rows_of t (d_data w)))
-                       | None => is_error a
-                       end
-           | None => is_error a
-           end
-         | _ => match a with ARows _ _ | AHist _ _ => want_commit r v t a | _ => true end   (* refusing is fine; rows must be the right ones *)
-         end
-n    if revdb_denotes r v then want_commit r v t a
-    else match (norm_base r (fst v), snd v) with
-         | (BBranch b, []) =>                         (* dirty branch: `db/branch` is the branch's working set *)
-           match branch_working r b with
-           | Some w => match assoc t (d_schema w) with
-                       | Some cols => ans_eqb a (ARows cols (rows_of t (d_data w)))
-                       | None => is_error a
-                       end
-           | None => is_error a
-           end
-         | _ => match a with ARows _ _ | AHist _ _ => want_commit r v t a | _ => true end   (* refusing is fine; rows must be the right ones *)
-         end
-     if revdb_denotes r v then want_commit r v t a
-    else match (norm_base r (fst v), snd v) with
-         | (BBranch b, []) =>                         (* dirty branch: `db/branch` is the branch's working set *)
-           match branch_working r b with
-           | Some w => match assoc t (d_schema w) with
-                       | Some cols => ans_eqb a (ARows cols (rows_of t (d_data w)))
-                       | None => is_error a
-                       end
-           | None => is_error a
-           end
-         | _ => match a with ARows _ _ | AHist _ _ => want_commit r v t a | _ => true end   (* refusing is fine; rows must be the right ones *)
-         end
-c    if revdb_denotes r v then want_commit r v t a
-    else match (norm_base r (fst v), snd v) with
-         | (BBranch b, []) =>                         (* dirty branch: `db/branch` is the branch's working set *)
-           match branch_working r b with
-           | Some w => match assoc t (d_schema w) with
-                       | Some cols => ans_eqb a (ARows cols (rows_of t (d_data w)))
-                       | None => is_error a
-                       end
-           | None => is_error a
-           end
-         | _ => match a with ARows _ _ | AHist _ _ => want_commit r v t a | _ => true end   (* refusing is fine; rows must be the right ones *)
-         end
-a    if revdb_denotes r v then want_commit r v t a
-    else match (norm_base r (fst v), snd v) with
-         | (BBranch b, []) =>                         (* dirty branch: `db/branch` is the branch's working set *)
-           match branch_working r b with
-           | Some w => match assoc t (d_schema w) with
-                       | Some cols => ans_eqb a (ARows cols (rows_of t (d_data w)))
-                       | None => is_error a
-                       end
-           | None => is_error a
-           end
-         | _ => match a with ARows _ _ | AHist _ _ => want_commit r v t a | _ => true end   (* refusing is fine; rows must be the right ones *)
-         end
-s    if revdb_denotes r v then want_commit r v t a
-    else match (norm_base r (fst v), snd v) with
-         | (BBranch b, []) =>                         (* dirty branch: `db/branch` is the branch's working set *)
-           match branch_working r b with
-           | Some w => match assoc t (d_schema w) with
-                       | Some cols => ans_eqb a (ARows cols (rows_of t (d_data w)))
-                       | None => is_error a
-                       end
-           | None => is_error a
-           end
-         | _ => match a with ARows _ _ | AHist _ _ => want_commit r v t a | _ => true end   (* refusing is fine; rows must be the right ones *)
-         end
-e    if revdb_denotes r v then want_commit r v t a
-    else match (norm_base r (fst v), snd v) with
-         | (BBranch b, []) =>                         (* dirty branch: `db/branch` is the branch's working set *)
-           match branch_working r b with
-           | Some w => match assoc t (d_schema w) with
-                       | Some cols => ans_eqb a (ARows cols (rows_of t (d_data w)))
-                       | None => is_error a
-                       end
-           | None => is_error a
-           end
-         | _ => match a with ARows _ _ | AHist _ _ => want_commit r v t a | _ => true end   (* refusing is fine; rows must be the right ones *)
-         end
-     if revdb_denotes r v then want_commit r v t a
-    else match (norm_base r (fst v), snd v) with
-         | (BBranch b, []) =>                         (* dirty branch: `db/branch` is the branch's working set *)
-           match branch_working r b with
-           | Some w => match assoc t (d_schema w) with
-                       | Some cols => ans_eqb a (ARows cols (rows_of t (d_data w)))
-                       | None => is_error a
-                       end
-           | None => is_error a
-           end
-         | _ => match a with ARows _ _ | AHist _ _ => want_commit r v t a | _ => true end   (* refusing is fine; rows must be the right ones *)
-         end
-:    if revdb_denotes r v then want_commit r v t a
-    else match (norm_base r (fst v), snd v) with
-         | (BBranch b, []) =>                         (* dirty branch: `db/branch` is the branch's working set *)
-           match branch_working r b with
-           | Some w => match assoc t (d_schema w) with
-                       | Some cols => ans_eqb a (ARows cols (rows_of t (d_data w)))
-                       | None => is_error a
-                       end
-           | None => is_error a
-           end
-         | _ => match a with ARows _ _ | AHist _ _ => want_commit r v t a | _ => true end   (* refusing is fine; rows must be the right ones *)
-         end
-=    if revdb_denotes r v then want_commit r v t a
-    else match (norm_base r (fst v), snd v) with
-         | (BBranch b, []) =>                         (* dirty branch: `db/branch` is the branch's working set *)
-           match branch_working r b with
-           | Some w => match assoc t (d_schema w) with
-                       | Some cols => ans_eqb a (ARows cols (rows_of t (d_data w)))
-                       | None => is_error a
-                       end
-           | None => is_error a
-           end
-         | _ => match a with ARows _ _ | AHist _ _ => want_commit r v t a | _ => true end   (* refusing is fine; rows must be the right ones *)
-         end
-     if revdb_denotes r v then want_commit r v t a
-    else match (norm_base r (fst v), snd v) with
-         | (BBranch b, []) =>                         (* dirty branch: `db/branch` is the branch's working set *)
-           match branch_working r b with
-           | Some w => match assoc t (d_schema w) with
-                       | Some cols => ans_eqb a (ARows cols (rows_of t (d_data w)))
-                       | None => is_error a
-                       end
-           | None => is_error a
-           end
-         | _ => match a with ARows _ _ | AHist _ _ => want_commit r v t a | _ => true end   (* refusing is fine; rows must be the right ones *)
-         end
-(    if revdb_denotes r v then want_commit r v t a
-    else match (norm_base r (fst v), snd v) with
-         | (BBranch b, []) =>                         (* dirty branch: `db/branch` is the branch's working set *)
-           match branch_working r b with
-           | Some w => match assoc t (d_schema w) with
-                       | Some cols => ans_eqb a (ARows cols (rows_of t (d_data w)))
-                       | None => is_error a
-                       end
-           | None => is_error a
-           end
-         | _ => match a with ARows _ _ | AHist _ _ => want_commit r v t a | _ => true end   (* refusing is fine; rows must be the right ones *)
-         end
-i    if revdb_denotes r v then want_commit r v t a
-    else match (norm_base r (fst v), snd v) with
-         | (BBranch b, []) =>                         (* dirty branch: `db/branch` is the branch's working set *)
-           match branch_working r b with
-           | Some w => match assoc t (d_schema w) with
-                       | Some cols => ans_eqb a (ARows cols (rows_of t (d_data w)))
-                       | None => is_error a
-                       end
-           | None => is_error a
-           end
-         | _ => match a with ARows _ _ | AHist _ _ => want_commit r v t a | _ => true end   (* refusing is fine; rows must be the right ones *)
-         end
-n    if revdb_denotes r v then want_commit r v t a
-    else match (norm_base r (fst v), snd v) with
-         | (BBranch b, []) =>                         (* dirty branch: `db/branch` is the branch's working set *)
-           match branch_working r b with
-           | Some w => match assoc t (d_schema w) with
-                       | Some cols => ans_eqb a (ARows cols (rows_of t (d_data w)))
-                       | None => is_error a
-                       end
-           | None => is_error a
-           end
-         | _ => match a with ARows _ _ | AHist _ _ => want_commit r v t a | _ => true end   (* refusing is fine; rows must be the right ones *)
-         end
-p    if revdb_denotes r v then want_commit r v t a
-    else match (norm_base r (fst v), snd v) with
-         | (BBranch b, []) =>                         (* dirty branch: `db/branch` is the branch's working set *)
-           match branch_working r b with
-           | Some w => match assoc t (d_schema w) with
-                       | Some cols => ans_eqb a (ARows cols (rows_of t (d_data w)))
-                       | None => is_error a
-                       end
-           | None => is_error a
-           end
-         | _ => match a with ARows _ _ | AHist _ _ => want_commit r v t a | _ => true end   (* refusing is fine; rows must be the right ones *)
-         end
-u    if revdb_denotes r v then want_commit r v t a
-    else match (norm_base r (fst v), snd v) with
-         | (BBranch b, []) =>                         (* dirty branch: `db/branch` is the branch's working set *)
-           match branch_working r b with
-           | Some w => match assoc t (d_schema w) with
-                       | Some cols => ans_eqb a (ARows cols (rows_of t (d_data w)))
-                       | None => is_error a
-                       end
-           | None => is_error a
-           end
-         | _ => match a with ARows _ _ | AHist _ _ => want_commit r v t a | _ => true end   (* refusing is fine; rows must be the right ones *)
-         end
-t    if revdb_denotes r v then want_commit r v t a
-    else match (norm_base r (fst v), snd v) with
-         | (BBranch b, []) =>                         (* dirty branch: `db/branch` is the branch's working set *)
-           match branch_working r b with
-           | Some w => match assoc t (d_schema w) with
-                       | Some cols => ans_eqb a (ARows cols (rows_of t (d_data w)))
-                       | None => is_error a
-                       end
-           | None => is_error a
-           end
-         | _ => match a with ARows _ _ | AHist _ _ => want_commit r v t a | _ => true end   (* refusing is fine; rows must be the right ones *)
-         end
-     if revdb_denotes r v then want_commit r v t a
-    else match (norm_base r (fst v), snd v) with
-         | (BBranch b, []) =>                         (* dirty branch: `db/branch` is the branch's working set *)
-           match branch_working r b with
-           | Some w => match assoc t (d_schema w) with
-                       | Some cols => ans_eqb a (ARows cols (rows_of t (d_data w)))
-                       | None => is_error a
-                       end
-           | None => is_error a
-           end
-         | _ => match a with ARows _ _ | AHist _ _ => want_commit r v t a | _ => true end   (* refusing is fine; rows must be the right ones *)
-         end
-*    if revdb_denotes r v then want_commit r v t a
-    else match (norm_base r (fst v), snd v) with
-         | (BBranch b, []) =>                         (* dirty branch: `db/branch` is the branch's working set *)
-           match branch_working r b with
-           | Some w => match assoc t (d_schema w) with
-                       | Some cols => ans_eqb a (ARows cols (rows_of t (d_data w)))
-                       | None => is_error a
-                       end
-           | None => is_error a
-           end
-         | _ => match a with ARows _ _ | AHist _ _ => want_commit r v t a | _ => true end   (* refusing is fine; rows must be the right ones *)
-         end
-     if revdb_denotes r v then want_commit r v t a
-    else match (norm_base r (fst v), snd v) with
-         | (BBranch b, []) =>                         (* dirty branch: `db/branch` is the branch's working set *)
-           match branch_working r b with
-           | Some w => match assoc t (d_schema w) with
-                       | Some cols => ans_eqb a (ARows cols (rows_of t (d_data w)))
-                       | None => is_error a
-                       end
-           | None => is_error a
-           end
-         | _ => match a with ARows _ _ | AHist _ _ => want_commit r v t a | _ => true end   (* refusing is fine; rows must be the right ones *)
-         end
-o    if revdb_denotes r v then want_commit r v t a
-    else match (norm_base r (fst v), snd v) with
-         | (BBranch b, []) =>                         (* dirty branch: `db/branch` is the branch's working set *)
-           match branch_working r b with
-           | Some w => match assoc t (d_schema w) with
-                       | Some cols => ans_eqb a (ARows cols (rows_of t (d_data w)))
-                       | None => is_error a
-                       end
-           | None => is_error a
-           end
-         | _ => match a with ARows _ _ | AHist _ _ => want_commit r v t a | _ => true end   (* refusing is fine; rows must be the right ones *)
-         end
-b    if revdb_denotes r v then want_commit r v t a
-    else match (norm_base r (fst v), snd v) with
-         | (BBranch b, []) =>                         (* dirty branch: `db/branch` is the branch's working set *)
-           match branch_working r b with
-           | Some w => match assoc t (d_schema w) with
-                       | Some cols => ans_eqb a (ARows cols (rows_of t (d_data w)))
-                       | None => is_error a
-                       end
-           | None => is_error a
-           end
-         | _ => match a with ARows _ _ | AHist _ _ => want_commit r v t a | _ => true end   (* refusing is fine; rows must be the right ones *)
-         end
-s    if revdb_denotes r v then want_commit r v t a
-    else match (norm_base r (fst v), snd v) with
-         | (BBranch b, []) =>                         (* dirty branch: `db/branch` is the branch's working set *)
-           match branch_working r b with
-           | Some w => match assoc t (d_schema w) with
-                       | Some cols => ans_eqb a (ARows cols (rows_of t (d_data w)))
-                       | None => is_error a
-                       end
-           | None => is_error a
-           end
-         | _ => match a with ARows _ _ | AHist _ _ => want_commit r v t a | _ => true end   (* refusing is fine; rows must be the right ones *)
-         end
-)    if revdb_denotes r v then want_commit r v t a
-    else match (norm_base r (fst v), snd v) with
-         | (BBranch b, []) =>                         (* dirty branch: `db/branch` is the branch's working set *)
-           match branch_working r b with
-           | Some w => match assoc t (d_schema w) with
-                       | Some cols => ans_eqb a (ARows cols (rows_of t (d_data w)))
-                       | None => is_error a
-                       end
-           | None => is_error a
-           end
-         | _ => match a with ARows _ _ | AHist _ _ => want_commit r v t a | _ => true end   (* refusing is fine; rows must be the right ones *)
-         end
-%    if revdb_denotes r v then want_commit r v t a
-    else match (norm_base r (fst v), snd v) with
-         | (BBranch b, []) =>                         (* dirty branch: `db/branch` is the branch's working set *)
-           match branch_working r b with
-           | Some w => match assoc t (d_schema w) with
-                       | Some cols => ans_eqb a (ARows cols (rows_of t (d_data w)))
-                       | None => is_error a
-                       end
-           | None => is_error a
-           end
-         | _ => match a with ARows _ _ | AHist _ _ => want_commit r v t a | _ => true end   (* refusing is fine; rows must be the right ones *)
-         end
-t    if revdb_denotes r v then want_commit r v t a
-    else match (norm_base r (fst v), snd v) with
-         | (BBranch b, []) =>                         (* dirty branch: `db/branch` is the branch's working set *)
-           match branch_working r b with
-           | Some w => match assoc t (d_schema w) with
-                       | Some cols => ans_eqb a (ARows cols (rows_of t (d_data w)))
-                       | None => is_error a
-                       end
-           | None => is_error a
-           end
-         | _ => match a with ARows _ _ | AHist _ _ => want_commit r v t a | _ => true end   (* refusing is fine; rows must be the right ones *)
-         end
-y    if revdb_denotes r v then want_commit r v t a
-    else match (norm_base r (fst v), snd v) with
-         | (BBranch b, []) =>                         (* dirty branch: `db/branch` is the branch's working set *)
-           match branch_working r b with
-           | Some w => match assoc t (d_schema w) with
-                       | Some cols => ans_eqb a (ARows cols (rows_of t (d_data w)))
-                       | None => is_error a
-                       end
-           | None => is_error a
-           end
-         | _ => match a with ARows _ _ | AHist _ _ => want_commit r v t a | _ => true end   (* refusing is fine; rows must be the right ones *)
-         end
-p    if revdb_denotes r v then want_commit r v t a
-    else match (norm_base r (fst v), snd v) with
-         | (BBranch b, []) =>                         (* dirty branch: `db/branch` is the branch's working set *)
-           match branch_working r b with
-           | Some w => match assoc t (d_schema w) with
-                       | Some cols => ans_eqb a (ARows cols (rows_of t (d_data w)))
-                       | None => is_error a
-                       end
-           | None => is_error a
-           end
-         | _ => match a with ARows _ _ | AHist _ _ => want_commit r v t a | _ => true end   (* refusing is fine; rows must be the right ones *)
-         end
-e    if revdb_denotes r v then want_commit r v t a
-    else match (norm_base r (fst v), snd v) with
-         | (BBranch b, []) =>                         (* dirty branch: `db/branch` is the branch's working set *)
-           match branch_working r b with
-           | Some w => match assoc t (d_schema w) with
-                       | Some cols => ans_eqb a (ARows cols (rows_of t (d_data w)))
-                       | None => is_error a
-                       end
-           | None => is_error a
-           end
-         | _ => match a with ARows _ _ | AHist _ _ => want_commit r v t a | _ => true end   (* refusing is fine; rows must be the right ones *)
-         end
-.    if revdb_denotes r v then want_commit r v t a
-    else match (norm_base r (fst v), snd v) with
-         | (BBranch b, []) =>                         (* dirty branch: `db/branch` is the branch's working set *)
-           match branch_working r b with
-           | Some w => match assoc t (d_schema w) with
-                       | Some cols => ans_eqb a (ARows cols (rows_of t (d_data w)))
-                       | None => is_error a
-                       end
-           | None => is_error a
-           end
-         | _ => match a with ARows _ _ | AHist _ _ => want_commit r v t a | _ => true end   (* refusing is fine; rows must be the right ones *)
-         end
-
-    if revdb_denotes r v then want_commit r v t a
-    else match (norm_base r (fst v), snd v) with
-         | (BBranch b, []) =>                         (* dirty branch: `db/branch` is the branch's working set *)
-           match branch_working r b with
-           | Some w => match assoc t (d_schema w) with
-                       | Some cols => ans_eqb a (ARows cols (rows_of t (d_data w)))
-                       | None => is_error a
-                       end
-           | None => is_error a
-           end
-         | _ => match a with ARows _ _ | AHist _ _ => want_commit r v t a | _ => true end   (* refusing is fine; rows must be the right ones *)
-         end
-
-    if revdb_denotes r v then want_commit r v t a
-    else match (norm_base r (fst v), snd v) with
-         | (BBranch b, []) =>                         (* dirty branch: `db/branch` is the branch's working set *)
-           match branch_working r b with
-           | Some w => match assoc t (d_schema w) with
-                       | Some cols => ans_eqb a (ARows cols (rows_of t (d_data w)))
-                       | None => is_error a
-                       end
-           | None => is_error a
-           end
-         | _ => match a with ARows _ _ | AHist _ _ => want_commit r v t a | _ => true end   (* refusing is fine; rows must be the right ones *)
-         end
-D    if revdb_denotes r v then want_commit r v t a
-    else match (norm_base r (fst v), snd v) with
-         | (BBranch b, []) =>                         (* dirty branch: `db/branch` is the branch's working set *)
-           match branch_working r b with
-           | Some w => match assoc t (d_schema w) with
-                       | Some cols => ans_eqb a (ARows cols (rows_of t (d_data w)))
-                       | None => is_error a
-                       end
-           | None => is_error a
-           end
-         | _ => match a with ARows _ _ | AHist _ _ => want_commit r v t a | _ => true end   (* refusing is fine; rows must be the right ones *)
-         end
-e    if revdb_denotes r v then want_commit r v t a
-    else match (norm_base r (fst v), snd v) with
-         | (BBranch b, []) =>                         (* dirty branch: `db/branch` is the branch's working set *)
-           match branch_working r b with
-           | Some w => match assoc t (d_schema w) with
-                       | Some cols => ans_eqb a (ARows cols (rows_of t (d_data w)))
-                       | None => is_error a
-                       end
-           | None => is_error a
-           end
-         | _ => match a with ARows _ _ | AHist _ _ => want_commit r v t a | _ => true end   (* refusing is fine; rows must be the right ones *)
-         end
-f    if revdb_denotes r v then want_commit r v t a
-    else match (norm_base r (fst v), snd v) with
-         | (BBranch b, []) =>                         (* dirty branch: `db/branch` is the branch's working set *)
-           match branch_working r b with
-           | Some w => match assoc t (d_schema w) with
-                       | Some cols => ans_eqb a (ARows cols (rows_of t (d_data w)))
-                       | None => is_error a
-                       end
-           | None => is_error a
-           end
-         | _ => match a with ARows _ _ | AHist _ _ => want_commit r v t a | _ => true end   (* refusing is fine; rows must be the right ones *)
-         end
-i    if revdb_denotes r v then want_commit r v t a
-    else match (norm_base r (fst v), snd v) with
-         | (BBranch b, []) =>                         (* dirty branch: `db/branch` is the branch's working set *)
-           match branch_working r b with
-           | Some w => match assoc t (d_schema w) with
-                       | Some cols => ans_eqb a (ARows cols (rows_of t (d_data w)))
-                       | None => is_error a
-                       end
-           | None => is_error a
-           end
-         | _ => match a with ARows _ _ | AHist _ _ => want_commit r v t a | _ => true end   (* refusing is fine; rows must be the right ones *)
-         end
-n    if revdb_denotes r v then want_commit r v t a
-    else match (norm_base r (fst v), snd v) with
-         | (BBranch b, []) =>                         (* dirty branch: `db/branch` is the branch's working set *)
-           match branch_working r b with
-           | Some w => match assoc t (d_schema w) with
-                       | Some cols => ans_eqb a (ARows cols (rows_of t (d_data w)))
-                       | None => is_error a
-                       end
-           | None => is_error a
-           end
-         | _ => match a with ARows _ _ | AHist _ _ => want_commit r v t a | _ => true end   (* refusing is fine; rows must be the right ones *)
-         end
-i    if revdb_denotes r v then want_commit r v t a
-    else match (norm_base r (fst v), snd v) with
-         | (BBranch b, []) =>                         (* dirty branch: `db/branch` is the branch's working set *)
-           match branch_working r b with
-           | Some w => match assoc t (d_schema w) with
-                       | Some cols => ans_eqb a (ARows cols (rows_of t (d_data w)))
-                       | None => is_error a
-                       end
-           | None => is_error a
-           end
-         | _ => match a with ARows _ _ | AHist _ _ => want_commit r v t a | _ => true end   (* refusing is fine; rows must be the right ones *)
-         end
-t    if revdb_denotes r v then want_commit r v t a
-    else match (norm_base r (fst v), snd v) with
-         | (BBranch b, []) =>                         (* dirty branch: `db/branch` is the branch's working set *)
-           match branch_working r b with
-           | Some w => match assoc t (d_schema w) with
-                       | Some cols => ans_eqb a (ARows cols (rows_of t (d_data w)))
-                       | None => is_error a
-                       end
-           | None => is_error a
-           end
-         | _ => match a with ARows _ _ | AHist _ _ => want_commit r v t a | _ => true end   (* refusing is fine; rows must be the right ones *)
-         end
-i    if revdb_denotes r v then want_commit r v t a
-    else match (norm_base r (fst v), snd v) with
-         | (BBranch b, []) =>                         (* dirty branch: `db/branch` is the branch's working set *)
-           match branch_working r b with
-           | Some w => match assoc t (d_schema w) with
-                       | Some cols => ans_eqb a (ARows cols (rows_of t (d_data w)))
-                       | None => is_error a
-                       end
-           | None => is_error a
-           end
-         | _ => match a with ARows _ _ | AHist _ _ => want_commit r v t a | _ => true end   (* refusing is fine; rows must be the right ones *)
-         end
-o    if revdb_denotes r v then want_commit r v t a
-    else match (norm_base r (fst v), snd v) with
-         | (BBranch b, []) =>                         (* dirty branch: `db/branch` is the branch's working set *)
-           match branch_working r b with
-           | Some w => match assoc t (d_schema w) with
-                       | Some cols => ans_eqb a (ARows cols (rows_of t (d_data w)))
-                       | None => is_error a
-                       end
-           | None => is_error a
-           end
-         | _ => match a with ARows _ _ | AHist _ _ => want_commit r v t a | _ => true end   (* refusing is fine; rows must be the right ones *)
-         end
-n    if revdb_denotes r v then want_commit r v t a
-    else match (norm_base r (fst v), snd v) with
-         | (BBranch b, []) =>                         (* dirty branch: `db/branch` is the branch's working set *)
-           match branch_working r b with
-           | Some w => match assoc t (d_schema w) with
-                       | Some cols => ans_eqb a (ARows cols (rows_of t (d_data w)))
-                       | None => is_error a
-                       end
-           | None => is_error a
-           end
-         | _ => match a with ARows _ _ | AHist _ _ => want_commit r v t a | _ => true end   (* refusing is fine; rows must be the right ones *)
-         end
-     if revdb_denotes r v then want_commit r v t a
-    else match (norm_base r (fst v), snd v) with
-         | (BBranch b, []) =>                         (* dirty branch: `db/branch` is the branch's working set *)
-           match branch_working r b with
-           | Some w => match assoc t (d_schema w) with
-                       | Some cols => ans_eqb a (ARows cols (rows_of t (d_data w)))
-                       | None => is_error a
-                       end
-           | None => is_error a
-           end
-         | _ => match a with ARows _ _ | AHist _ _ => want_commit r v t a | _ => true end   (* refusing is fine; rows must be the right ones *)
-         end
-a    if revdb_denotes r v then want_commit r v t a
-    else match (norm_base r (fst v), snd v) with
-         | (BBranch b, []) =>                         (* dirty branch: `db/branch` is the branch's working set *)
-           match branch_working r b with
-           | Some w => match assoc t (d_schema w) with
-                       | Some cols => ans_eqb a (ARows cols (rows_of t (d_data w)))
-                       | None => is_error a
-                       end
-           | None => is_error a
-           end
-         | _ => match a with ARows _ _ | AHist _ _ => want_commit r v t a | _ => true end   (* refusing is fine; rows must be the right ones *)
-         end
-n    if revdb_denotes r v then want_commit r v t a
-    else match (norm_base r (fst v), snd v) with
-         | (BBranch b, []) =>                         (* dirty branch: `db/branch` is the branch's working set *)
-           match branch_working r b with
-           | Some w => match assoc t (d_schema w) with
-                       | Some cols => ans_eqb a (ARows cols (rows_of t (d_data w)))
-                       | None => is_error a
-                       end
-           | None => is_error a
-           end
-         | _ => match a with ARows _ _ | AHist _ _ => want_commit r v t a | _ => true end   (* refusing is fine; rows must be the right ones *)
-         end
-s    if revdb_denotes r v then want_commit r v t a
-    else match (norm_base r (fst v), snd v) with
-         | (BBranch b, []) =>                         (* dirty branch: `db/branch` is the branch's working set *)
-           match branch_working r b with
-           | Some w => match assoc t (d_schema w) with
-                       | Some cols => ans_eqb a (ARows cols (rows_of t (d_data w)))
-                       | None => is_error a
-                       end
-           | None => is_error a
-           end
-         | _ => match a with ARows _ _ | AHist _ _ => want_commit r v t a | _ => true end   (* refusing is fine; rows must be the right ones *)
-         end
-w    if revdb_denotes r v then want_commit r v t a
-    else match (norm_base r (fst v), snd v) with
-         | (BBranch b, []) =>                         (* dirty branch: `db/branch` is the branch's working set *)
-           match branch_working r b with
-           | Some w => match assoc t (d_schema w) with
-                       | Some cols => ans_eqb a (ARows cols (rows_of t (d_data w)))
-                       | None => is_error a
-                       end
-           | None => is_error a
-           end
-         | _ => match a with ARows _ _ | AHist _ _ => want_commit r v t a | _ => true end   (* refusing is fine; rows must be the right ones *)
-         end
-e    if revdb_denotes r v then want_commit r v t a
-    else match (norm_base r (fst v), snd v) with
-         | (BBranch b, []) =>                         (* dirty branch: `db/branch` is the branch's working set *)
-           match branch_working r b with
-           | Some w => match assoc t (d_schema w) with
-                       | Some cols => ans_eqb a (ARows cols (rows_of t (d_data w)))
-                       | None => is_error a
-                       end
-           | None => is_error a
-           end
-         | _ => match a with ARows _ _ | AHist _ _ => want_commit r v t a | _ => true end   (* refusing is fine; rows must be the right ones *)
-         end
-r    if revdb_denotes r v then want_commit r v t a
-    else match (norm_base r (fst v), snd v) with
-         | (BBranch b, []) =>                         (* dirty branch: `db/branch` is the branch's working set *)
-           match branch_working r b with
-           | Some w => match assoc t (d_schema w) with
-                       | Some cols => ans_eqb a (ARows cols (rows_of t (d_data w)))
-                       | None => is_error a
-                       end
-           | None => is_error a
-           end
-         | _ => match a with ARows _ _ | AHist _ _ => want_commit r v t a | _ => true end   (* refusing is fine; rows must be the right ones *)
-         end
-     if revdb_denotes r v then want_commit r v t a
-    else match (norm_base r (fst v), snd v) with
-         | (BBranch b, []) =>                         (* dirty branch: `db/branch` is the branch's working set *)
-           match branch_working r b with
-           | Some w => match assoc t (d_schema w) with
-                       | Some cols => ans_eqb a (ARows cols (rows_of t (d_data w)))
-                       | None => is_error a
-                       end
-           | None => is_error a
-           end
-         | _ => match a with ARows _ _ | AHist _ _ => want_commit r v t a | _ => true end   (* refusing is fine; rows must be the right ones *)
-         end
-(    if revdb_denotes r v then want_commit r v t a
-    else match (norm_base r (fst v), snd v) with
-         | (BBranch b, []) =>                         (* dirty branch: `db/branch` is the branch's working set *)
-           match branch_working r b with
-           | Some w => match assoc t (d_schema w) with
-                       | Some cols => ans_eqb a (ARows cols (rows_of t (d_data w)))
-                       | None => is_error a
-                       end
-           | None => is_error a
-           end
-         | _ => match a with ARows _ _ | AHist _ _ => want_commit r v t a | _ => true end   (* refusing is fine; rows must be the right ones *)
-         end
-r    if revdb_denotes r v then want_commit r v t a
-    else match (norm_base r (fst v), snd v) with
-         | (BBranch b, []) =>                         (* dirty branch: `db/branch` is the branch's working set *)
-           match branch_working r b with
-           | Some w => match assoc t (d_schema w) with
-                       | Some cols => ans_eqb a (ARows cols (rows_of t (d_data w)))
-                       | None => is_error a
-                       end
-           | None => is_error a
-           end
-         | _ => match a with ARows _ _ | AHist _ _ => want_commit r v t a | _ => true end   (* refusing is fine; rows must be the right ones *)
-         end
-     if revdb_denotes r v then want_commit r v t a
-    else match (norm_base r (fst v), snd v) with
-         | (BBranch b, []) =>                         (* dirty branch: `db/branch` is the branch's working set *)
-           match branch_working r b with
-           | Some w => match assoc t (d_schema w) with
-                       | Some cols => ans_eqb a (ARows cols (rows_of t (d_data w)))
-                       | None => is_error a
-                       end
-           | None => is_error a
-           end
-         | _ => match a with ARows _ _ | AHist _ _ => want_commit r v t a | _ => true end   (* refusing is fine; rows must be the right ones *)
-         end
-:    if revdb_denotes r v then want_commit r v t a
-    else match (norm_base r (fst v), snd v) with
-         | (BBranch b, []) =>                         (* dirty branch: `db/branch` is the branch's working set *)
-           match branch_working r b with
-           | Some w => match assoc t (d_schema w) with
-                       | Some cols => ans_eqb a (ARows cols (rows_of t (d_data w)))
-                       | None => is_error a
-                       end
-           | None => is_error a
-           end
-         | _ => match a with ARows _ _ | AHist _ _ => want_commit r v t a | _ => true end   (* refusing is fine; rows must be the right ones *)
-         end
-     if revdb_denotes r v then want_commit r v t a
-    else match (norm_base r (fst v), snd v) with
-         | (BBranch b, []) =>                         (* dirty branch: `db/branch` is the branch's working set *)
-           match branch_working r b with
-           | Some w => match assoc t (d_schema w) with
-                       | Some cols => ans_eqb a (ARows cols (rows_of t (d_data w)))
-                       | None => is_error a
-                       end
-           | None => is_error a
-           end
-         | _ => match a with ARows _ _ | AHist _ _ => want_commit r v t a | _ => true end   (* refusing is fine; rows must be the right ones *)
-         end
-r    if revdb_denotes r v then want_commit r v t a
-    else match (norm_base r (fst v), snd v) with
-         | (BBranch b, []) =>                         (* dirty branch: `db/branch` is the branch's working set *)
-           match branch_working r b with
-           | Some w => match assoc t (d_schema w) with
-                       | Some cols => ans_eqb a (ARows cols (rows_of t (d_data w)))
-                       | None => is_error a
-                       end
-           | None => is_error a
-           end
-         | _ => match a with ARows _ _ | AHist _ _ => want_commit r v t a | _ => true end   (* refusing is fine; rows must be the right ones *)
-         end
-e    if revdb_denotes r v then want_commit r v t a
-    else match (norm_base r (fst v), snd v) with
-         | (BBranch b, []) =>                         (* dirty branch: `db/branch` is the branch's working set *)
-           match branch_working r b with
-           | Some w => match assoc t (d_schema w) with
-                       | Some cols => ans_eqb a (ARows cols (rows_of t (d_data w)))
-                       | None => is_error a
-                       end
-           | None => is_error a
-           end
-         | _ => match a with ARows _ _ | AHist _ _ => want_commit r v t a | _ => true end   (* refusing is fine; rows must be the right ones *)
-         end
-p    if revdb_denotes r v then want_commit r v t a
-    else match (norm_base r (fst v), snd v) with
-         | (BBranch b, []) =>                         (* dirty branch: `db/branch` is the branch's working set *)
-           match branch_working r b with
-           | Some w => match assoc t (d_schema w) with
-                       | Some cols => ans_eqb a (ARows cols (rows_of t (d_data w)))
-                       | None => is_error a
-                       end
-           | None => is_error a
-           end
-         | _ => match a with ARows _ _ | AHist _ _ => want_commit r v t a | _ => true end   (* refusing is fine; rows must be the right ones *)
-         end
-o    if revdb_denotes r v then want_commit r v t a
-    else match (norm_base r (fst v), snd v) with
-         | (BBranch b, []) =>                         (* dirty branch: `db/branch` is the branch's working set *)
-           match branch_working r b with
-           | Some w => match assoc t (d_schema w) with
-                       | Some cols => ans_eqb a (ARows cols (rows_of t (d_data w)))
-                       | None => is_error a
-                       end
-           | None => is_error a
-           end
-         | _ => match a with ARows _ _ | AHist _ _ => want_commit r v t a | _ => true end   (* refusing is fine; rows must be the right ones *)
-         end
-)    if revdb_denotes r v then want_commit r v t a
-    else match (norm_base r (fst v), snd v) with
-         | (BBranch b, []) =>                         (* dirty branch: `db/branch` is the branch's working set *)
-           match branch_working r b with
-           | Some w => match assoc t (d_schema w) with
-                       | Some cols => ans_eqb a (ARows cols (rows_of t (d_data w)))
-                       | None => is_error a
-                       end
-           | None => is_error a
-           end
-         | _ => match a with ARows _ _ | AHist _ _ => want_commit r v t a | _ => true end   (* refusing is fine; rows must be the right ones *)
-         end
-     if revdb_denotes r v then want_commit r v t a
-    else match (norm_base r (fst v), snd v) with
-         | (BBranch b, []) =>                         (* dirty branch: `db/branch` is the branch's working set *)
-           match branch_working r b with
-           | Some w => match assoc t (d_schema w) with
-                       | Some cols => ans_eqb a (ARows cols (rows_of t (d_data w)))
-                       | None => is_error a
-                       end
-           | None => is_error a
-           end
-         | _ => match a with ARows _ _ | AHist _ _ => want_commit r v t a | _ => true end   (* refusing is fine; rows must be the right ones *)
-         end
-(    if revdb_denotes r v then want_commit r v t a
-    else match (norm_base r (fst v), snd v) with
-         | (BBranch b, []) =>                         (* dirty branch: `db/branch` is the branch's working set *)
-           match branch_working r b with
-           | Some w => match assoc t (d_schema w) with
-                       | Some cols => ans_eqb a (ARows cols (rows_of t (d_data w)))
-                       | None => is_error a
-                       end
-           | None => is_error a
-           end
-         | _ => match a with ARows _ _ | AHist _ _ => want_commit r v t a | _ => true end   (* refusing is fine; rows must be the right ones *)
-         end
-q    if revdb_denotes r v then want_commit r v t a
-    else match (norm_base r (fst v), snd v) with
-         | (BBranch b, []) =>                         (* dirty branch: `db/branch` is the branch's working set *)
-           match branch_working r b with
-           | Some w => match assoc t (d_schema w) with
-                       | Some cols => ans_eqb a (ARows cols (rows_of t (d_data w)))
-                       | None => is_error a
-                       end
-           | None => is_error a
-           end
-         | _ => match a with ARows _ _ | AHist _ _ => want_commit r v t a | _ => true end   (* refusing is fine; rows must be the right ones *)
-         end
-     if revdb_denotes r v then want_commit r v t a
-    else match (norm_base r (fst v), snd v) with
-         | (BBranch b, []) =>                         (* dirty branch: `db/branch` is the branch's working set *)
-           match branch_working r b with
-           | Some w => match assoc t (d_schema w) with
-                       | Some cols => ans_eqb a (ARows cols (rows_of t (d_data w)))
-                       | None => is_error a
-                       end
-           | None => is_error a
-           end
-         | _ => match a with ARows _ _ | AHist _ _ => want_commit r v t a | _ => true end   (* refusing is fine; rows must be the right ones *)
-         end
-:    if revdb_denotes r v then want_commit r v t a
-    else match (norm_base r (fst v), snd v) with
-         | (BBranch b, []) =>                         (* dirty branch: `db/branch` is the branch's working set *)
-           match branch_working r b with
-           | Some w => match assoc t (d_schema w) with
-                       | Some cols => ans_eqb a (ARows cols (rows_of t (d_data w)))
-                       | None => is_error a
-                       end
-           | None => is_error a
-           end
-         | _ => match a with ARows _ _ | AHist _ _ => want_commit r v t a | _ => true end   (* refusing is fine; rows must be the right ones *)
-         end
-     if revdb_denotes r v then want_commit r v t a
-    else match (norm_base r (fst v), snd v) with
-         | (BBranch b, []) =>                         (* dirty branch: `db/branch` is the branch's working set *)
-           match branch_working r b with
-           | Some w => match assoc t (d_schema w) with
-                       | Some cols => ans_eqb a (ARows cols (rows_of t (d_data w)))
-                       | None => is_error a
-                       end
-           | None => is_error a
-           end
-         | _ => match a with ARows _ _ | AHist _ _ => want_commit r v t a | _ => true end   (* refusing is fine; rows must be the right ones *)
-         end
-q    if revdb_denotes r v then want_commit r v t a
-    else match (norm_base r (fst v), snd v) with
-         | (BBranch b, []) =>                         (* dirty branch: `db/branch` is the branch's working set *)
-           match branch_working r b with
-           | Some w => match assoc t (d_schema w) with
-                       | Some cols => ans_eqb a (ARows cols (rows_of t (d_data w)))
-                       | None => is_error a
-                       end
-           | None => is_error a
-           end
-         | _ => match a with ARows _ _ | AHist _ _ => want_commit r v t a | _ => true end   (* refusing is fine; rows must be the right ones *)
-         end
-u    if revdb_denotes r v then want_commit r v t a
-    else match (norm_base r (fst v), snd v) with
-         | (BBranch b, []) =>                         (* dirty branch: `db/branch` is the branch's working set *)
-           match branch_working r b with
-           | Some w => match assoc t (d_schema w) with
-                       | Some cols => ans_eqb a (ARows cols (rows_of t (d_data w)))
-                       | None => is_error a
-                       end
-           | None => is_error a
-           end
-         | _ => match a with ARows _ _ | AHist _ _ => want_commit r v t a | _ => true end   (* refusing is fine; rows must be the right ones *)
-         end
-e    if revdb_denotes r v then want_commit r v t a
-    else match (norm_base r (fst v), snd v) with
-         | (BBranch b, []) =>                         (* dirty branch: `db/branch` is the branch's working set *)
-           match branch_working r b with
-           | Some w => match assoc t (d_schema w) with
-                       | Some cols => ans_eqb a (ARows cols (rows_of t (d_data w)))
-                       | None => is_error a
-                       end
-           | None => is_error a
-           end
-         | _ => match a with ARows _ _ | AHist _ _ => want_commit r v t a | _ => true end   (* refusing is fine; rows must be the right ones *)
-         end
-r    if revdb_denotes r v then want_commit r v t a
-    else match (norm_base r (fst v), snd v) with
-         | (BBranch b, []) =>                         (* dirty branch: `db/branch` is the branch's working set *)
-           match branch_working r b with
-           | Some w => match assoc t (d_schema w) with
-                       | Some cols => ans_eqb a (ARows cols (rows_of t (d_data w)))
-                       | None => is_error a
-                       end
-           | None => is_error a
-           end
-         | _ => match a with ARows _ _ | AHist _ _ => want_commit r v t a | _ => true end   (* refusing is fine; rows must be the right ones *)
-         end
-y    if revdb_denotes r v then want_commit r v t a
-    else match (norm_base r (fst v), snd v) with
-         | (BBranch b, []) =>                         (* dirty branch: `db/branch` is the branch's working set *)
-           match branch_working r b with
-           | Some w => match assoc t (d_schema w) with
-                       | Some cols => ans_eqb a (ARows cols (rows_of t (d_data w)))
-                       | None => is_error a
-                       end
-           | None => is_error a
-           end
-         | _ => match a with ARows _ _ | AHist _ _ => want_commit r v t a | _ => true end   (* refusing is fine; rows must be the right ones *)
-         end
-)    if revdb_denotes r v then want_commit r v t a
-    else match (norm_base r (fst v), snd v) with
-         | (BBranch b, []) =>                         (* dirty branch: `db/branch` is the branch's working set *)
-           match branch_working r b with
-           | Some w => match assoc t (d_schema w) with
-                       | Some cols => ans_eqb a (ARows cols (rows_of t (d_data w)))
-                       | None => is_error a
-                       end
-           | None => is_error a
-           end
-         | _ => match a with ARows _ _ | AHist _ _ => want_commit r v t a | _ => true end   (* refusing is fine; rows must be the right ones *)
-         end
-     if revdb_denotes r v then want_commit r v t a
-    else match (norm_base r (fst v), snd v) with
-         | (BBranch b, []) =>                         (* dirty branch: `db/branch` is the branch's working set *)
-           match branch_working r b with
-           | Some w => match assoc t (d_schema w) with
-                       | Some cols => ans_eqb a (ARows cols (rows_of t (d_data w)))
-                       | None => is_error a
-                       end
-           | None => is_error a
-           end
-         | _ => match a with ARows _ _ | AHist _ _ => want_commit r v t a | _ => true end   (* refusing is fine; rows must be the right ones *)
-         end
-:    if revdb_denotes r v then want_commit r v t a
-    else match (norm_base r (fst v), snd v) with
-         | (BBranch b, []) =>                         (* dirty branch: `db/branch` is the branch's working set *)
-           match branch_working r b with
-           | Some w => match assoc t (d_schema w) with
-                       | Some cols => ans_eqb a (ARows cols (rows_of t (d_data w)))
-                       | None => is_error a
-                       end
-           | None => is_error a
-           end
-         | _ => match a with ARows _ _ | AHist _ _ => want_commit r v t a | _ => true end   (* refusing is fine; rows must be the right ones *)
-         end
-     if revdb_denotes r v then want_commit r v t a
-    else match (norm_base r (fst v), snd v) with
-         | (BBranch b, []) =>                         (* dirty branch: `db/branch` is the branch's working set *)
-           match branch_working r b with
-           | Some w => match assoc t (d_schema w) with
-                       | Some cols => ans_eqb a (ARows cols (rows_of t (d_data w)))
-                       | None => is_error a
-                       end
-           | None => is_error a
-           end
-         | _ => match a with ARows _ _ | AHist _ _ => want_commit r v t a | _ => true end   (* refusing is fine; rows must be the right ones *)
-         end
-a    if revdb_denotes r v then want_commit r v t a
-    else match (norm_base r (fst v), snd v) with
-         | (BBranch b, []) =>                         (* dirty branch: `db/branch` is the branch's working set *)
-           match branch_working r b with
-           | Some w => match assoc t (d_schema w) with
-                       | Some cols => ans_eqb a (ARows cols (rows_of t (d_data w)))
-                       | None => is_error a
-                       end
-           | None => is_error a
-           end
-         | _ => match a with ARows _ _ | AHist _ _ => want_commit r v t a | _ => true end   (* refusing is fine; rows must be the right ones *)
-         end
-n    if revdb_denotes r v then want_commit r v t a
-    else match (norm_base r (fst v), snd v) with
-         | (BBranch b, []) =>                         (* dirty branch: `db/branch` is the branch's working set *)
-           match branch_working r b with
-           | Some w => match assoc t (d_schema w) with
-                       | Some cols => ans_eqb a (ARows cols (rows_of t (d_data w)))
-                       | None => is_error a
-                       end
-           | None => is_error a
-           end
-         | _ => match a with ARows _ _ | AHist _ _ => want_commit r v t a | _ => true end   (* refusing is fine; rows must be the right ones *)
-         end
-s    if revdb_denotes r v then want_commit r v t a
-    else match (norm_base r (fst v), snd v) with
-         | (BBranch b, []) =>                         (* dirty branch: `db/branch` is the branch's working set *)
-           match branch_working r b with
-           | Some w => match assoc t (d_schema w) with
-                       | Some cols => ans_eqb a (ARows cols (rows_of t (d_data w)))
-                       | None => is_error a
-                       end
-           | None => is_error a
-           end
-         | _ => match a with ARows _ _ | AHist _ _ => want_commit r v t a | _ => true end   (* refusing is fine; rows must be the right ones *)
-         end
-     if revdb_denotes r v then want_commit r v t a
-    else match (norm_base r (fst v), snd v) with
-         | (BBranch b, []) =>                         (* dirty branch: `db/branch` is the branch's working set *)
-           match branch_working r b with
-           | Some w => match assoc t (d_schema w) with
-                       | Some cols => ans_eqb a (ARows cols (rows_of t (d_data w)))
-                       | None => is_error a
-                       end
-           | None => is_error a
-           end
-         | _ => match a with ARows _ _ | AHist _ _ => want_commit r v t a | _ => true end   (* refusing is fine; rows must be the right ones *)
-         end
-:    if revdb_denotes r v then want_commit r v t a
-    else match (norm_base r (fst v), snd v) with
-         | (BBranch b, []) =>                         (* dirty branch: `db/branch` is the branch's working set *)
-           match branch_working r b with
-           | Some w => match assoc t (d_schema w) with
-                       | Some cols => ans_eqb a (ARows cols (rows_of t (d_data w)))
-                       | None => is_error a
-                       end
-           | None => is_error a
-           end
-         | _ => match a with ARows _ _ | AHist _ _ => want_commit r v t a | _ => true end   (* refusing is fine; rows must be the right ones *)
-         end
-=    if revdb_denotes r v then want_commit r v t a
-    else match (norm_base r (fst v), snd v) with
-         | (BBranch b, []) =>                         (* dirty branch: `db/branch` is the branch's working set *)
-           match branch_working r b with
-           | Some w => match assoc t (d_schema w) with
-                       | Some cols => ans_eqb a (ARows cols (rows_of t (d_data w)))
-                       | None => is_error a
-                       end
-           | None => is_error a
-           end
-         | _ => match a with ARows _ _ | AHist _ _ => want_commit r v t a | _ => true end   (* refusing is fine; rows must be the right ones *)
-         end
-
-    if revdb_denotes r v then want_commit r v t a
-    else match (norm_base r (fst v), snd v) with
-         | (BBranch b, []) =>                         (* dirty branch: `db/branch` is the branch's working set *)
-           match branch_working r b with
-           | Some w => match assoc t (d_schema w) with
-                       | Some cols => ans_eqb a (ARows cols (rows_of t (d_data w)))
-                       | None => is_error a
-                       end
-           | None => is_error a
-           end
-         | _ => match a with ARows _ _ | AHist _ _ => want_commit r v t a | _ => true end   (* refusing is fine; rows must be the right ones *)
-         end
-     if revdb_denotes r v then want_commit r v t a
-    else match (norm_base r (fst v), snd v) with
-         | (BBranch b, []) =>                         (* dirty branch: `db/branch` is the branch's working set *)
-           match branch_working r b with
-           | Some w => match assoc t (d_schema w) with
-                       | Some cols => ans_eqb a (ARows cols (rows_of t (d_data w)))
-                       | None => is_error a
-                       end
-           | None => is_error a
-           end
-         | _ => match a with ARows _ _ | AHist _ _ => want_commit r v t a | _ => true end   (* refusing is fine; rows must be the right ones *)
-         end
-     if revdb_denotes r v then want_commit r v t a
-    else match (norm_base r (fst v), snd v) with
-         | (BBranch b, []) =>                         (* dirty branch: `db/branch` is the branch's working set *)
-           match branch_working r b with
-           | Some w => match assoc t (d_schema w) with
-                       | Some cols => ans_eqb a (ARows cols (rows_of t (d_data w)))
-                       | None => is_error a
-                       end
-           | None => is_error a
-           end
-         | _ => match a with ARows _ _ | AHist _ _ => want_commit r v t a | _ => true end   (* refusing is fine; rows must be the right ones *)
-         end
-m    if revdb_denotes r v then want_commit r v t a
-    else match (norm_base r (fst v), snd v) with
-         | (BBranch b, []) =>                         (* dirty branch: `db/branch` is the branch's working set *)
-           match branch_working r b with
-           | Some w => match assoc t (d_schema w) with
-                       | Some cols => ans_eqb a (ARows cols (rows_of t (d_data w)))
-                       | None => is_error a
-                       end
-           | None => is_error a
-           end
-         | _ => match a with ARows _ _ | AHist _ _ => want_commit r v t a | _ => true end   (* refusing is fine; rows must be the right ones *)
-         end
-a    if revdb_denotes r v then want_commit r v t a
-    else match (norm_base r (fst v), snd v) with
-         | (BBranch b, []) =>                         (* dirty branch: `db/branch` is the branch's working set *)
-           match branch_working r b with
-           | Some w => match assoc t (d_schema w) with
-                       | Some cols => ans_eqb a (ARows cols (rows_of t (d_data w)))
-                       | None => is_error a
-                       end
-           | None => is_error a
-           end
-         | _ => match a with ARows _ _ | AHist _ _ => want_commit r v t a | _ => true end   (* refusing is fine; rows must be the right ones *)
-         end
-t    if revdb_denotes r v then want_commit r v t a
-    else match (norm_base r (fst v), snd v) with
-         | (BBranch b, []) =>                         (* dirty branch: `db/branch` is the branch's working set *)
-           match branch_working r b with
-           | Some w => match assoc t (d_schema w) with
-                       | Some cols => ans_eqb a (ARows cols (rows_of t (d_data w)))
-                       | None => is_error a
-                       end
-           | None => is_error a
-           end
-         | _ => match a with ARows _ _ | AHist _ _ => want_commit r v t a | _ => true end   (* refusing is fine; rows must be the right ones *)
-         end
-c    if revdb_denotes r v then want_commit r v t a
-    else match (norm_base r (fst v), snd v) with
-         | (BBranch b, []) =>                         (* dirty branch: `db/branch` is the branch's working set *)
-           match branch_working r b with
-           | Some w => match assoc t (d_schema w) with
-                       | Some cols => ans_eqb a (ARows cols (rows_of t (d_data w)))
-                       | None => is_error a
-                       end
-           | None => is_error a
-           end
-         | _ => match a with ARows _ _ | AHist _ _ => want_commit r v t a | _ => true end   (* refusing is fine; rows must be the right ones *)
-         end
-h    if revdb_denotes r v then want_commit r v t a
-    else match (norm_base r (fst v), snd v) with
-         | (BBranch b, []) =>                         (* dirty branch: `db/branch` is the branch's working set *)
-           match branch_working r b with
-           | Some w => match assoc t (d_schema w) with
-                       | Some cols => ans_eqb a (ARows cols (rows_of t (d_data w)))
-                       | None => is_error a
-                       end
-           | None => is_error a
-           end
-         | _ => match a with ARows _ _ | AHist _ _ => want_commit r v t a | _ => true end   (* refusing is fine; rows must be the right ones *)
-         end
-     if revdb_denotes r v then want_commit r v t a
-    else match (norm_base r (fst v), snd v) with
-         | (BBranch b, []) =>                         (* dirty branch: `db/branch` is the branch's working set *)
-           match branch_working r b with
-           | Some w => match assoc t (d_schema w) with
-                       | Some cols => ans_eqb a (ARows cols (rows_of t (d_data w)))
-                       | None => is_error a
-                       end
-           | None => is_error a
-           end
-         | _ => match a with ARows _ _ | AHist _ _ => want_commit r v t a | _ => true end   (* refusing is fine; rows must be the right ones *)
-         end
-q    if revdb_denotes r v then want_commit r v t a
-    else match (norm_base r (fst v), snd v) with
-         | (BBranch b, []) =>                         (* dirty branch: `db/branch` is the branch's working set *)
-           match branch_working r b with
-           | Some w => match assoc t (d_schema w) with
-                       | Some cols => ans_eqb a (ARows cols (rows_of t (d_data w)))
-                       | None => is_error a
-                       end
-           | None => is_error a
-           end
-         | _ => match a with ARows _ _ | AHist _ _ => want_commit r v t a | _ => true end   (* refusing is fine; rows must be the right ones *)
-         end
-     if revdb_denotes r v then want_commit r v t a
-    else match (norm_base r (fst v), snd v) with
-         | (BBranch b, []) =>                         (* dirty branch: `db/branch` is the branch's working set *)
-           match branch_working r b with
-           | Some w => match assoc t (d_schema w) with
-                       | Some cols => ans_eqb a (ARows cols (rows_of t (d_data w)))
-                       | None => is_error a
-                       end
-           | None => is_error a
-           end
-         | _ => match a with ARows _ _ | AHist _ _ => want_commit r v t a | _ => true end   (* refusing is fine; rows must be the right ones *)
-         end
-w    if revdb_denotes r v then want_commit r v t a
-    else match (norm_base r (fst v), snd v) with
-         | (BBranch b, []) =>                         (* dirty branch: `db/branch` is the branch's working set *)
-           match branch_working r b with
-           | Some w => match assoc t (d_schema w) with
-                       | Some cols => ans_eqb a (ARows cols (rows_of t (d_data w)))
-                       | None => is_error a
-                       end
-           | None => is_error a
-           end
-         | _ => match a with ARows _ _ | AHist _ _ => want_commit r v t a | _ => true end   (* refusing is fine; rows must be the right ones *)
-         end
-i    if revdb_denotes r v then want_commit r v t a
-    else match (norm_base r (fst v), snd v) with
-         | (BBranch b, []) =>                         (* dirty branch: `db/branch` is the branch's working set *)
-           match branch_working r b with
-           | Some w => match assoc t (d_schema w) with
-                       | Some cols => ans_eqb a (ARows cols (rows_of t (d_data w)))
-                       | None => is_error a
-                       end
-           | None => is_error a
-           end
-         | _ => match a with ARows _ _ | AHist _ _ => want_commit r v t a | _ => true end   (* refusing is fine; rows must be the right ones *)
-         end
-t    if revdb_denotes r v then want_commit r v t a
-    else match (norm_base r (fst v), snd v) with
-         | (BBranch b, []) =>                         (* dirty branch: `db/branch` is the branch's working set *)
-           match branch_working r b with
-           | Some w => match assoc t (d_schema w) with
-                       | Some cols => ans_eqb a (ARows cols (rows_of t (d_data w)))
-                       | None => is_error a
-                       end
-           | None => is_error a
-           end
-         | _ => match a with ARows _ _ | AHist _ _ => want_commit r v t a | _ => true end   (* refusing is fine; rows must be the right ones *)
-         end
-h    if revdb_denotes r v then want_commit r v t a
-    else match (norm_base r (fst v), snd v) with
-         | (BBranch b, []) =>                         (* dirty branch: `db/branch` is the branch's working set *)
-           match branch_working r b with
-           | Some w => match assoc t (d_schema w) with
-                       | Some cols => ans_eqb a (ARows cols (rows_of t (d_data w)))
-                       | None => is_error a
-                       end
-           | None => is_error a
-           end
-         | _ => match a with ARows _ _ | AHist _ _ => want_commit r v t a | _ => true end   (* refusing is fine; rows must be the right ones *)
-         end
-
-    if revdb_denotes r v then want_commit r v t a
-    else match (norm_base r (fst v), snd v) with
-         | (BBranch b, []) =>                         (* dirty branch: `db/branch` is the branch's working set *)
-           match branch_working r b with
-           | Some w => match assoc t (d_schema w) with
-                       | Some cols => ans_eqb a (ARows cols (rows_of t (d_data w)))
-                       | None => is_error a
-                       end
-           | None => is_error a
-           end
-         | _ => match a with ARows _ _ | AHist _ _ => want_commit r v t a | _ => true end   (* refusing is fine; rows must be the right ones *)
-         end
-     if revdb_denotes r v then want_commit r v t a
-    else match (norm_base r (fst v), snd v) with
-         | (BBranch b, []) =>                         (* dirty branch: `db/branch` is the branch's working set *)
-           match branch_working r b with
-           | Some w => match assoc t (d_schema w) with
-                       | Some cols => ans_eqb a (ARows cols (rows_of t (d_data w)))
-                       | None => is_error a
-                       end
-           | None => is_error a
-           end
-         | _ => match a with ARows _ _ | AHist _ _ => want_commit r v t a | _ => true end   (* refusing is fine; rows must be the right ones *)
-         end
-     if revdb_denotes r v then want_commit r v t a
-    else match (norm_base r (fst v), snd v) with
-         | (BBranch b, []) =>                         (* dirty branch: `db/branch` is the branch's working set *)
-           match branch_working r b with
-           | Some w => match assoc t (d_schema w) with
-                       | Some cols => ans_eqb a (ARows cols (rows_of t (d_data w)))
-                       | None => is_error a
-                       end
-           | None => is_error a
-           end
-         | _ => match a with ARows _ _ | AHist _ _ => want_commit r v t a | _ => true end   (* refusing is fine; rows must be the right ones *)
-         end
-|    if revdb_denotes r v then want_commit r v t a
-    else match (norm_base r (fst v), snd v) with
-         | (BBranch b, []) =>                         (* dirty branch: `db/branch` is the branch's working set *)
-           match branch_working r b with
-           | Some w => match assoc t (d_schema w) with
-                       | Some cols => ans_eqb a (ARows cols (rows_of t (d_data w)))
-                       | None => is_error a
-                       end
-           | None => is_error a
-           end
-         | _ => match a with ARows _ _ | AHist _ _ => want_commit r v t a | _ => true end   (* refusing is fine; rows must be the right ones *)
-         end
-     if revdb_denotes r v then want_commit r v t a
-    else match (norm_base r (fst v), snd v) with
-         | (BBranch b, []) =>                         (* dirty branch: `db/branch` is the branch's working set *)
-           match branch_working r b with
-           | Some w => match assoc t (d_schema w) with
-                       | Some cols => ans_eqb a (ARows cols (rows_of t (d_data w)))
-                       | None => is_error a
-                       end
-           | None => is_error a
-           end
-         | _ => match a with ARows _ _ | AHist _ _ => want_commit r v t a | _ => true end   (* refusing is fine; rows must be the right ones *)
-         end
-Q    if revdb_denotes r v then want_commit r v t a
-    else match (norm_base r (fst v), snd v) with
-         | (BBranch b, []) =>                         (* dirty branch: `db/branch` is the branch's working set *)
-           match branch_working r b with
-           | Some w => match assoc t (d_schema w) with
-                       | Some cols => ans_eqb a (ARows cols (rows_of t (d_data w)))
-                       | None => is_error a
-                       end
-           | None => is_error a
-           end
-         | _ => match a with ARows _ _ | AHist _ _ => want_commit r v t a | _ => true end   (* refusing is fine; rows must be the right ones *)
-         end
-A    if revdb_denotes r v then want_commit r v t a
-    else match (norm_base r (fst v), snd v) with
-         | (BBranch b, []) =>                         (* dirty branch: `db/branch` is the branch's working set *)
-           match branch_working r b with
-           | Some w => match assoc t (d_schema w) with
-                       | Some cols => ans_eqb a (ARows cols (rows_of t (d_data w)))
-                       | None => is_error a
-                       end
-           | None => is_error a
-           end
-         | _ => match a with ARows _ _ | AHist _ _ => want_commit r v t a | _ => true end   (* refusing is fine; rows must be the right ones *)
-         end
-s    if revdb_denotes r v then want_commit r v t a
-    else match (norm_base r (fst v), snd v) with
-         | (BBranch b, []) =>                         (* dirty branch: `db/branch` is the branch's working set *)
-           match branch_working r b with
-           | Some w => match assoc t (d_schema w) with
-                       | Some cols => ans_eqb a (ARows cols (rows_of t (d_data w)))
-                       | None => is_error a
-                       end
-           | None => is_error a
-           end
-         | _ => match a with ARows _ _ | AHist _ _ => want_commit r v t a | _ => true end   (* refusing is fine; rows must be the right ones *)
-         end
-O    if revdb_denotes r v then want_commit r v t a
-    else match (norm_base r (fst v), snd v) with
-         | (BBranch b, []) =>                         (* dirty branch: `db/branch` is the branch's working set *)
-           match branch_working r b with
-           | Some w => match assoc t (d_schema w) with
-                       | Some cols => ans_eqb a (ARows cols (rows_of t (d_data w)))
-                       | None => is_error a
-                       end
-           | None => is_error a
-           end
-         | _ => match a with ARows _ _ | AHist _ _ => want_commit r v t a | _ => true end   (* refusing is fine; rows must be the right ones *)
-         end
-f    if revdb_denotes r v then want_commit r v t a
-    else match (norm_base r (fst v), snd v) with
-         | (BBranch b, []) =>                         (* dirty branch: `db/branch` is the branch's working set *)
-           match branch_working r b with
-           | Some w => match assoc t (d_schema w) with
-                       | Some cols => ans_eqb a (ARows cols (rows_of t (d_data w)))
-                       | None => is_error a
-                       end
-           | None => is_error a
-           end
-         | _ => match a with ARows _ _ | AHist _ _ => want_commit r v t a | _ => true end   (* refusing is fine; rows must be the right ones *)
-         end
-     if revdb_denotes r v then want_commit r v t a
-    else match (norm_base r (fst v), snd v) with
-         | (BBranch b, []) =>                         (* dirty branch: `db/branch` is the branch's working set *)
-           match branch_working r b with
-           | Some w => match assoc t (d_schema w) with
-                       | Some cols => ans_eqb a (ARows cols (rows_of t (d_data w)))
-                       | None => is_error a
-                       end
-           | None => is_error a
-           end
-         | _ => match a with ARows _ _ | AHist _ _ => want_commit r v t a | _ => true end   (* refusing is fine; rows must be the right ones *)
-         end
-v    if revdb_denotes r v then want_commit r v t a
-    else match (norm_base r (fst v), snd v) with
-         | (BBranch b, []) =>                         (* dirty branch: `db/branch` is the branch's working set *)
-           match branch_working r b with
-           | Some w => match assoc t (d_schema w) with
-                       | Some cols => ans_eqb a (ARows cols (rows_of t (d_data w)))
-                       | None => is_error a
-                       end
-           | None => is_error a
-           end
-         | _ => match a with ARows _ _ | AHist _ _ => want_commit r v t a | _ => true end   (* refusing is fine; rows must be the right ones *)
-         end
-     if revdb_denotes r v then want_commit r v t a
-    else match (norm_base r (fst v), snd v) with
-         | (BBranch b, []) =>                         (* dirty branch: `db/branch` is the branch's working set *)
-           match branch_working r b with
-           | Some w => match assoc t (d_schema w) with
-                       | Some cols => ans_eqb a (ARows cols (rows_of t (d_data w)))
-                       | None => is_error a
-                       end
-           | None => is_error a
-           end
-         | _ => match a with ARows _ _ | AHist _ _ => want_commit r v t a | _ => true end   (* refusing is fine; rows must be the right ones *)
-         end
-t    if revdb_denotes r v then want_commit r v t a
-    else match (norm_base r (fst v), snd v) with
-         | (BBranch b, []) =>                         (* dirty branch: `db/branch` is the branch's working set *)
-           match branch_working r b with
-           | Some w => match assoc t (d_schema w) with
-                       | Some cols => ans_eqb a (ARows cols (rows_of t (d_data w)))
-                       | None => is_error a
-                       end
-           | None => is_error a
-           end
-         | _ => match a with ARows _ _ | AHist _ _ => want_commit r v t a | _ => true end   (* refusing is fine; rows must be the right ones *)
-         end
-     if revdb_denotes r v then want_commit r v t a
-    else match (norm_base r (fst v), snd v) with
-         | (BBranch b, []) =>                         (* dirty branch: `db/branch` is the branch's working set *)
-           match branch_working r b with
-           | Some w => match assoc t (d_schema w) with
-                       | Some cols => ans_eqb a (ARows cols (rows_of t (d_data w)))
-                       | None => is_error a
-                       end
-           | None => is_error a
-           end
-         | _ => match a with ARows _ _ | AHist _ _ => want_commit r v t a | _ => true end   (* refusing is fine; rows must be the right ones *)
-         end
-=    if revdb_denotes r v then want_commit r v t a
-    else match (norm_base r (fst v), snd v) with
-         | (BBranch b, []) =>                         (* dirty branch: `db/branch` is the branch's working set *)
-           match branch_working r b with
-           | Some w => match assoc t (d_schema w) with
-                       | Some cols => ans_eqb a (ARows cols (rows_of t (d_data w)))
-                       | None => is_error a
-                       end
-           | None => is_error a
-           end
-         | _ => match a with ARows _ _ | AHist _ _ => want_commit r v t a | _ => true end   (* refusing is fine; rows must be the right ones *)
-         end
->    if revdb_denotes r v then want_commit r v t a
-    else match (norm_base r (fst v), snd v) with
-         | (BBranch b, []) =>                         (* dirty branch: `db/branch` is the branch's working set *)
-           match branch_working r b with
-           | Some w => match assoc t (d_schema w) with
-                       | Some cols => ans_eqb a (ARows cols (rows_of t (d_data w)))
-                       | None => is_error a
-                       end
-           | None => is_error a
-           end
-         | _ => match a with ARows _ _ | AHist _ _ => want_commit r v t a | _ => true end   (* refusing is fine; rows must be the right ones *)
-         end
-     if revdb_denotes r v then want_commit r v t a
-    else match (norm_base r (fst v), snd v) with
-         | (BBranch b, []) =>                         (* dirty branch: `db/branch` is the branch's working set *)
-           match branch_working r b with
-           | Some w => match assoc t (d_schema w) with
-                       | Some cols => ans_eqb a (ARows cols (rows_of t (d_data w)))
-                       | None => is_error a
-                       end
-           | None => is_error a
-           end
-         | _ => match a with ARows _ _ | AHist _ _ => want_commit r v t a | _ => true end   (* refusing is fine; rows must be the right ones *)
-         end
-a    if revdb_denotes r v then want_commit r v t a
-    else match (norm_base r (fst v), snd v) with
-         | (BBranch b, []) =>                         (* dirty branch: `db/branch` is the branch's working set *)
-           match branch_working r b with
-           | Some w => match assoc t (d_schema w) with
-                       | Some cols => ans_eqb a (ARows cols (rows_of t (d_data w)))
-                       | None => is_error a
-                       end
-           | None => is_error a
-           end
-         | _ => match a with ARows _ _ | AHist _ _ => want_commit r v t a | _ => true end   (* refusing is fine; rows must be the right ones *)
-         end
-s    if revdb_denotes r v then want_commit r v t a
-    else match (norm_base r (fst v), snd v) with
-         | (BBranch b, []) =>                         (* dirty branch: `db/branch` is the branch's working set *)
-           match branch_working r b with
-           | Some w => match assoc t (d_schema w) with
-                       | Some cols => ans_eqb a (ARows cols (rows_of t (d_data w)))
-                       | None => is_error a
-                       end
-           | None => is_error a
-           end
-         | _ => match a with ARows _ _ | AHist _ _ => want_commit r v t a | _ => true end   (* refusing is fine; rows must be the right ones *)
-         end
-_    if revdb_denotes r v then want_commit r v t a
-    else match (norm_base r (fst v), snd v) with
-         | (BBranch b, []) =>                         (* dirty branch: `db/branch` is the branch's working set *)
-           match branch_working r b with
-           | Some w => match assoc t (d_schema w) with
-                       | Some cols => ans_eqb a (ARows cols (rows_of t (d_data w)))
-                       | None => is_error a
-                       end
-           | None => is_error a
-           end
-         | _ => match a with ARows _ _ | AHist _ _ => want_commit r v t a | _ => true end   (* refusing is fine; rows must be the right ones *)
-         end
-o    if revdb_denotes r v then want_commit r v t a
-    else match (norm_base r (fst v), snd v) with
-         | (BBranch b, []) =>                         (* dirty branch: `db/branch` is the branch's working set *)
-           match branch_working r b with
-           | Some w => match assoc t (d_schema w) with
-                       | Some cols => ans_eqb a (ARows cols (rows_of t (d_data w)))
-                       | None => is_error a
-                       end
-           | None => is_error a
-           end
-         | _ => match a with ARows _ _ | AHist _ _ => want_commit r v t a | _ => true end   (* refusing is fine; rows must be the right ones *)
-         end
-f    if revdb_denotes r v then want_commit r v t a
-    else match (norm_base r (fst v), snd v) with
-         | (BBranch b, []) =>                         (* dirty branch: `db/branch` is the branch's working set *)
-           match branch_working r b with
-           | Some w => match assoc t (d_schema w) with
-                       | Some cols => ans_eqb a (ARows cols (rows_of t (d_data w)))
-                       | None => is_error a
-                       end
-           | None => is_error a
-           end
-         | _ => match a with ARows _ _ | AHist _ _ => want_commit r v t a | _ => true end   (* refusing is fine; rows must be the right ones *)
-         end
-     if revdb_denotes r v then want_commit r v t a
-    else match (norm_base r (fst v), snd v) with
-         | (BBranch b, []) =>                         (* dirty branch: `db/branch` is the branch's working set *)
-           match branch_working r b with
-           | Some w => match assoc t (d_schema w) with
-                       | Some cols => ans_eqb a (ARows cols (rows_of t (d_data w)))
-                       | None => is_error a
-                       end
-           | None => is_error a
-           end
-         | _ => match a with ARows _ _ | AHist _ _ => want_commit r v t a | _ => true end   (* refusing is fine; rows must be the right ones *)
-         end
-r    if revdb_denotes r v then want_commit r v t a
-    else match (norm_base r (fst v), snd v) with
-         | (BBranch b, []) =>                         (* dirty branch: `db/branch` is the branch's working set *)
-           match branch_working r b with
-           | Some w => match assoc t (d_schema w) with
-                       | Some cols => ans_eqb a (ARows cols (rows_of t (d_data w)))
-                       | None => is_error a
-                       end
-           | None => is_error a
-           end
-         | _ => match a with ARows _ _ | AHist _ _ => want_commit r v t a | _ => true end   (* refusing is fine; rows must be the right ones *)
-         end
-     if revdb_denotes r v then want_commit r v t a
-    else match (norm_base r (fst v), snd v) with
-         | (BBranch b, []) =>                         (* dirty branch: `db/branch` is the branch's working set *)
-           match branch_working r b with
-           | Some w => match assoc t (d_schema w) with
-                       | Some cols => ans_eqb a (ARows cols (rows_of t (d_data w)))
-                       | None => is_error a
-                       end
-           | None => is_error a
-           end
-         | _ => match a with ARows _ _ | AHist _ _ => want_commit r v t a | _ => true end   (* refusing is fine; rows must be the right ones *)
-         end
-v    if revdb_denotes r v then want_commit r v t a
-    else match (norm_base r (fst v), snd v) with
-         | (BBranch b, []) =>                         (* dirty branch: `db/branch` is the branch's working set *)
-           match branch_working r b with
-           | Some w => match assoc t (d_schema w) with
-                       | Some cols => ans_eqb a (ARows cols (rows_of t (d_data w)))
-                       | None => is_error a
-                       end
-           | None => is_error a
-           end
-         | _ => match a with ARows _ _ | AHist _ _ => want_commit r v t a | _ => true end   (* refusing is fine; rows must be the right ones *)
-         end
-     if revdb_denotes r v then want_commit r v t a
-    else match (norm_base r (fst v), snd v) with
-         | (BBranch b, []) =>                         (* dirty branch: `db/branch` is the branch's working set *)
-           match branch_working r b with
-           | Some w => match assoc t (d_schema w) with
-                       | Some cols => ans_eqb a (ARows cols (rows_of t (d_data w)))
-                       | None => is_error a
-                       end
-           | None => is_error a
-           end
-         | _ => match a with ARows _ _ | AHist _ _ => want_commit r v t a | _ => true end   (* refusing is fine; rows must be the right ones *)
-         end
-t    if revdb_denotes r v then want_commit r v t a
-    else match (norm_base r (fst v), snd v) with
-         | (BBranch b, []) =>                         (* dirty branch: `db/branch` is the branch's working set *)
-           match branch_working r b with
-           | Some w => match assoc t (d_schema w) with
-                       | Some cols => ans_eqb a (ARows cols (rows_of t (d_data w)))
-                       | None => is_error a
-                       end
-           | None => is_error a
-           end
-         | _ => match a with ARows _ _ | AHist _ _ => want_commit r v t a | _ => true end   (* refusing is fine; rows must be the right ones *)
-         end
-
-    if revdb_denotes r v then want_commit r v t a
-    else match (norm_base r (fst v), snd v) with
-         | (BBranch b, []) =>                         (* dirty branch: `db/branch` is the branch's working set *)
-           match branch_working r b with
-           | Some w => match assoc t (d_schema w) with
-                       | Some cols => ans_eqb a (ARows cols (rows_of t (d_data w)))
-                       | None => is_error a
-                       end
-           | None => is_error a
-           end
-         | _ => match a with ARows _ _ | AHist _ _ => want_commit r v t a | _ => true end   (* refusing is fine; rows must be the right ones *)
-         end
-     if revdb_denotes r v then want_commit r v t a
-    else match (norm_base r (fst v), snd v) with
-         | (BBranch b, []) =>                         (* dirty branch: `db/branch` is the branch's working set *)
-           match branch_working r b with
-           | Some w => match assoc t (d_schema w) with
-                       | Some cols => ans_eqb a (ARows cols (rows_of t (d_data w)))
-                       | None => is_error a
-                       end
-           | None => is_error a
-           end
-         | _ => match a with ARows _ _ | AHist _ _ => want_commit r v t a | _ => true end   (* refusing is fine; rows must be the right ones *)
-         end
-     if revdb_denotes r v then want_commit r v t a
-    else match (norm_base r (fst v), snd v) with
-         | (BBranch b, []) =>                         (* dirty branch: `db/branch` is the branch's working set *)
-           match branch_working r b with
-           | Some w => match assoc t (d_schema w) with
-                       | Some cols => ans_eqb a (ARows cols (rows_of t (d_data w)))
-                       | None => is_error a
-                       end
-           | None => is_error a
-           end
-         | _ => match a with ARows _ _ | AHist _ _ => want_commit r v t a | _ => true end   (* refusing is fine; rows must be the right ones *)
-         end
-|    if revdb_denotes r v then want_commit r v t a
-    else match (norm_base r (fst v), snd v) with
-         | (BBranch b, []) =>                         (* dirty branch: `db/branch` is the branch's working set *)
-           match branch_working r b with
-           | Some w => match assoc t (d_schema w) with
-                       | Some cols => ans_eqb a (ARows cols (rows_of t (d_data w)))
-                       | None => is_error a
-                       end
-           | None => is_error a
-           end
-         | _ => match a with ARows _ _ | AHist _ _ => want_commit r v t a | _ => true end   (* refusing is fine; rows must be the right ones *)
-         end
-     if revdb_denotes r v then want_commit r v t a
-    else match (norm_base r (fst v), snd v) with
-         | (BBranch b, []) =>                         (* dirty branch: `db/branch` is the branch's working set *)
-           match branch_working r b with
-           | Some w => match assoc t (d_schema w) with
-                       | Some cols => ans_eqb a (ARows cols (rows_of t (d_data w)))
-                       | None => is_error a
-                       end
-           | None => is_error a
-           end
-         | _ => match a with ARows _ _ | AHist _ _ => want_commit r v t a | _ => true end   (* refusing is fine; rows must be the right ones *)
-         end
-Q    if revdb_denotes r v then want_commit r v t a
-    else match (norm_base r (fst v), snd v) with
-         | (BBranch b, []) =>                         (* dirty branch: `db/branch` is the branch's working set *)
-           match branch_working r b with
-           | Some w => match assoc t (d_schema w) with
-                       | Some cols => ans_eqb a (ARows cols (rows_of t (d_data w)))
-                       | None => is_error a
-                       end
-           | None => is_error a
-           end
-         | _ => match a with ARows _ _ | AHist _ _ => want_commit r v t a | _ => true end   (* refusing is fine; rows must be the right ones *)
-         end
-R    if revdb_denotes r v then want_commit r v t a
-    else match (norm_base r (fst v), snd v) with
-         | (BBranch b, []) =>                         (* dirty branch: `db/branch` is the branch's working set *)
-           match branch_working r b with
-           | Some w => match assoc t (d_schema w) with
-                       | Some cols => ans_eqb a (ARows cols (rows_of t (d_data w)))
-                       | None => is_error a
-                       end
-           | None => is_error a
-           end
-         | _ => match a with ARows _ _ | AHist _ _ => want_commit r v t a | _ => true end   (* refusing is fine; rows must be the right ones *)
-         end
-e    if revdb_denotes r v then want_commit r v t a
-    else match (norm_base r (fst v), snd v) with
-         | (BBranch b, []) =>                         (* dirty branch: `db/branch` is the branch's working set *)
-           match branch_working r b with
-           | Some w => match assoc t (d_schema w) with
-                       | Some cols => ans_eqb a (ARows cols (rows_of t (d_data w)))
-                       | None => is_error a
-                       end
-           | None => is_error a
-           end
-         | _ => match a with ARows _ _ | AHist _ _ => want_commit r v t a | _ => true end   (* refusing is fine; rows must be the right ones *)
-         end
-v    if revdb_denotes r v then want_commit r v t a
-    else match (norm_base r (fst v), snd v) with
-         | (BBranch b, []) =>                         (* dirty branch: `db/branch` is the branch's working set *)
-           match branch_working r b with
-           | Some w => match assoc t (d_schema w) with
-                       | Some cols => ans_eqb a (ARows cols (rows_of t (d_data w)))
-                       | None => is_error a
-                       end
-           | None => is_error a
-           end
-         | _ => match a with ARows _ _ | AHist _ _ => want_commit r v t a | _ => true end   (* refusing is fine; rows must be the right ones *)
-         end
-D    if revdb_denotes r v then want_commit r v t a
-    else match (norm_base r (fst v), snd v) with
-         | (BBranch b, []) =>                         (* dirty branch: `db/branch` is the branch's working set *)
-           match branch_working r b with
-           | Some w => match assoc t (d_schema w) with
-                       | Some cols => ans_eqb a (ARows cols (rows_of t (d_data w)))
-                       | None => is_error a
-                       end
-           | None => is_error a
-           end
-         | _ => match a with ARows _ _ | AHist _ _ => want_commit r v t a | _ => true end   (* refusing is fine; rows must be the right ones *)
-         end
-b    if revdb_denotes r v then want_commit r v t a
-    else match (norm_base r (fst v), snd v) with
-         | (BBranch b, []) =>                         (* dirty branch: `db/branch` is the branch's working set *)
-           match branch_working r b with
-           | Some w => match assoc t (d_schema w) with
-                       | Some cols => ans_eqb a (ARows cols (rows_of t (d_data w)))
-                       | None => is_error a
-                       end
-           | None => is_error a
-           end
-         | _ => match a with ARows _ _ | AHist _ _ => want_commit r v t a | _ => true end   (* refusing is fine; rows must be the right ones *)
-         end
-     if revdb_denotes r v then want_commit r v t a
-    else match (norm_base r (fst v), snd v) with
-         | (BBranch b, []) =>                         (* dirty branch: `db/branch` is the branch's working set *)
-           match branch_working r b with
-           | Some w => match assoc t (d_schema w) with
-                       | Some cols => ans_eqb a (ARows cols (rows_of t (d_data w)))
-                       | None => is_error a
-                       end
-           | None => is_error a
-           end
-         | _ => match a with ARows _ _ | AHist _ _ => want_commit r v t a | _ => true end   (* refusing is fine; rows must be the right ones *)
-         end
-v    if revdb_denotes r v then want_commit r v t a
-    else match (norm_base r (fst v), snd v) with
-         | (BBranch b, []) =>                         (* dirty branch: `db/branch` is the branch's working set *)
-           match branch_working r b with
-           | Some w => match assoc t (d_schema w) with
-                       | Some cols => ans_eqb a (ARows cols (rows_of t (d_data w)))
-                       | None => is_error a
-                       end
-           | None => is_error a
-           end
-         | _ => match a with ARows _ _ | AHist _ _ => want_commit r v t a | _ => true end   (* refusing is fine; rows must be the right ones *)
-         end
-     if revdb_denotes r v then want_commit r v t a
-    else match (norm_base r (fst v), snd v) with
-         | (BBranch b, []) =>                         (* dirty branch: `db/branch` is the branch's working set *)
-           match branch_working r b with
-           | Some w => match assoc t (d_schema w) with
-                       | Some cols => ans_eqb a (ARows cols (rows_of t (d_data w)))
-                       | None => is_error a
-                       end
-           | None => is_error a
-           end
-         | _ => match a with ARows _ _ | AHist _ _ => want_commit r v t a | _ => true end   (* refusing is fine; rows must be the right ones *)
-         end
-t    if revdb_denotes r v then want_commit r v t a
-    else match (norm_base r (fst v), snd v) with
-         | (BBranch b, []) =>                         (* dirty branch: `db/branch` is the branch's working set *)
-           match branch_working r b with
-           | Some w => match assoc t (d_schema w) with
-                       | Some cols => ans_eqb a (ARows cols (rows_of t (d_data w)))
-                       | None => is_error a
-                       end
-           | None => is_error a
-           end
-         | _ => match a with ARows _ _ | AHist _ _ => want_commit r v t a | _ => true end   (* refusing is fine; rows must be the right ones *)
-         end
-     if revdb_denotes r v then want_commit r v t a
-    else match (norm_base r (fst v), snd v) with
-         | (BBranch b, []) =>                         (* dirty branch: `db/branch` is the branch's working set *)
-           match branch_working r b with
-           | Some w => match assoc t (d_schema w) with
-                       | Some cols => ans_eqb a (ARows cols (rows_of t (d_data w)))
-                       | None => is_error a
-                       end
-           | None => is_error a
-           end
-         | _ => match a with ARows _ _ | AHist _ _ => want_commit r v t a | _ => true end   (* refusing is fine; rows must be the right ones *)
-         end
-|    if revdb_denotes r v then want_commit r v t a
-    else match (norm_base r (fst v), snd v) with
-         | (BBranch b, []) =>                         (* dirty branch: `db/branch` is the branch's working set *)
-           match branch_working r b with
-           | Some w => match assoc t (d_schema w) with
-                       | Some cols => ans_eqb a (ARows cols (rows_of t (d_data w)))
-                       | None => is_error a
-                       end
-           | None => is_error a
-           end
-         | _ => match a with ARows _ _ | AHist _ _ => want_commit r v t a | _ => true end   (* refusing is fine; rows must be the right ones *)
-         end
-     if revdb_denotes r v then want_commit r v t a
-    else match (norm_base r (fst v), snd v) with
-         | (BBranch b, []) =>                         (* dirty branch: `db/branch` is the branch's working set *)
-           match branch_working r b with
-           | Some w => match assoc t (d_schema w) with
-                       | Some cols => ans_eqb a (ARows cols (rows_of t (d_data w)))
-                       | None => is_error a
-                       end
-           | None => is_error a
-           end
-         | _ => match a with ARows _ _ | AHist _ _ => want_commit r v t a | _ => true end   (* refusing is fine; rows must be the right ones *)
-         end
-Q    if revdb_denotes r v then want_commit r v t a
-    else match (norm_base r (fst v), snd v) with
-         | (BBranch b, []) =>                         (* dirty branch: `db/branch` is the branch's working set *)
-           match branch_working r b with
-           | Some w => match assoc t (d_schema w) with
-                       | Some cols => ans_eqb a (ARows cols (rows_of t (d_data w)))
-                       | None => is_error a
-                       end
-           | None => is_error a
-           end
-         | _ => match a with ARows _ _ | AHist _ _ => want_commit r v t a | _ => true end   (* refusing is fine; rows must be the right ones *)
-         end
-U    if revdb_denotes r v then want_commit r v t a
-    else match (norm_base r (fst v), snd v) with
-         | (BBranch b, []) =>                         (* dirty branch: `db/branch` is the branch's working set *)
-           match branch_working r b with
-           | Some w => match assoc t (d_schema w) with
-                       | Some cols => ans_eqb a (ARows cols (rows_of t (d_data w)))
-                       | None => is_error a
-                       end
-           | None => is_error a
-           end
-         | _ => match a with ARows _ _ | AHist _ _ => want_commit r v t a | _ => true end   (* refusing is fine; rows must be the right ones *)
-         end
-s    if revdb_denotes r v then want_commit r v t a
-    else match (norm_base r (fst v), snd v) with
-         | (BBranch b, []) =>                         (* dirty branch: `db/branch` is the branch's working set *)
-           match branch_working r b with
-           | Some w => match assoc t (d_schema w) with
-                       | Some cols => ans_eqb a (ARows cols (rows_of t (d_data w)))
-                       | None => is_error a
-                       end
-           | None => is_error a
-           end
-         | _ => match a with ARows _ _ | AHist _ _ => want_commit r v t a | _ => true end   (* refusing is fine; rows must be the right ones *)
-         end
-e    if revdb_denotes r v then want_commit r v t a
-    else match (norm_base r (fst v), snd v) with
-         | (BBranch b, []) =>                         (* dirty branch: `db/branch` is the branch's working set *)
-           match branch_working r b with
-           | Some w => match assoc t (d_schema w) with
-                       | Some cols => ans_eqb a (ARows cols (rows_of t (d_data w)))
-                       | None => is_error a
-                       end
-           | None => is_error a
-           end
-         | _ => match a with ARows _ _ | AHist _ _ => want_commit r v t a | _ => true end   (* refusing is fine; rows must be the right ones *)
-         end
-R    if revdb_denotes r v then want_commit r v t a
-    else match (norm_base r (fst v), snd v) with
-         | (BBranch b, []) =>                         (* dirty branch: `db/branch` is the branch's working set *)
-           match branch_working r b with
-           | Some w => match assoc t (d_schema w) with
-                       | Some cols => ans_eqb a (ARows cols (rows_of t (d_data w)))
-                       | None => is_error a
-                       end
-           | None => is_error a
-           end
-         | _ => match a with ARows _ _ | AHist _ _ => want_commit r v t a | _ => true end   (* refusing is fine; rows must be the right ones *)
-         end
-e    if revdb_denotes r v then want_commit r v t a
-    else match (norm_base r (fst v), snd v) with
-         | (BBranch b, []) =>                         (* dirty branch: `db/branch` is the branch's working set *)
-           match branch_working r b with
-           | Some w => match assoc t (d_schema w) with
-                       | Some cols => ans_eqb a (ARows cols (rows_of t (d_data w)))
-                       | None => is_error a
-                       end
-           | None => is_error a
-           end
-         | _ => match a with ARows _ _ | AHist _ _ => want_commit r v t a | _ => true end   (* refusing is fine; rows must be the right ones *)
-         end
-v    if revdb_denotes r v then want_commit r v t a
-    else match (norm_base r (fst v), snd v) with
-         | (BBranch b, []) =>                         (* dirty branch: `db/branch` is the branch's working set *)
-           match branch_working r b with
-           | Some w => match assoc t (d_schema w) with
-                       | Some cols => ans_eqb a (ARows cols (rows_of t (d_data w)))
-                       | None => is_error a
-                       end
-           | None => is_error a
-           end
-         | _ => match a with ARows _ _ | AHist _ _ => want_commit r v t a | _ => true end   (* refusing is fine; rows must be the right ones *)
-         end
-D    if revdb_denotes r v then want_commit r v t a
-    else match (norm_base r (fst v), snd v) with
-         | (BBranch b, []) =>                         (* dirty branch: `db/branch` is the branch's working set *)
-           match branch_working r b with
-           | Some w => match assoc t (d_schema w) with
-                       | Some cols => ans_eqb a (ARows cols (rows_of t (d_data w)))
-                       | None => is_error a
-                       end
-           | None => is_error a
-           end
-         | _ => match a with ARows _ _ | AHist _ _ => want_commit r v t a | _ => true end   (* refusing is fine; rows must be the right ones *)
-         end
-b    if revdb_denotes r v then want_commit r v t a
-    else match (norm_base r (fst v), snd v) with
-         | (BBranch b, []) =>                         (* dirty branch: `db/branch` is the branch's working set *)
-           match branch_working r b with
-           | Some w => match assoc t (d_schema w) with
-                       | Some cols => ans_eqb a (ARows cols (rows_of t (d_data w)))
-                       | None => is_error a
-                       end
-           | None => is_error a
-           end
-         | _ => match a with ARows _ _ | AHist _ _ => want_commit r v t a | _ => true end   (* refusing is fine; rows must be the right ones *)
-         end
-     if revdb_denotes r v then want_commit r v t a
-    else match (norm_base r (fst v), snd v) with
-         | (BBranch b, []) =>                         (* dirty branch: `db/branch` is the branch's working set *)
-           match branch_working r b with
-           | Some w => match assoc t (d_schema w) with
-                       | Some cols => ans_eqb a (ARows cols (rows_of t (d_data w)))
-                       | None => is_error a
-                       end
-           | None => is_error a
-           end
-         | _ => match a with ARows _ _ | AHist _ _ => want_commit r v t a | _ => true end   (* refusing is fine; rows must be the right ones *)
-         end
-v    if revdb_denotes r v then want_commit r v t a
-    else match (norm_base r (fst v), snd v) with
-         | (BBranch b, []) =>                         (* dirty branch: `db/branch` is the branch's working set *)
-           match branch_working r b with
-           | Some w => match assoc t (d_schema w) with
-                       | Some cols => ans_eqb a (ARows cols (rows_of t (d_data w)))
-                       | None => is_error a
-                       end
-           | None => is_error a
-           end
-         | _ => match a with ARows _ _ | AHist _ _ => want_commit r v t a | _ => true end   (* refusing is fine; rows must be the right ones *)
-         end
-     if revdb_denotes r v then want_commit r v t a
-    else match (norm_base r (fst v), snd v) with
-         | (BBranch b, []) =>                         (* dirty branch: `db/branch` is the branch's working set *)
-           match branch_working r b with
-           | Some w => match assoc t (d_schema w) with
-                       | Some cols => ans_eqb a (ARows cols (rows_of t (d_data w)))
-                       | None => is_error a
-                       end
-           | None => is_error a
-           end
-         | _ => match a with ARows _ _ | AHist _ _ => want_commit r v t a | _ => true end   (* refusing is fine; rows must be the right ones *)
-         end
-t    if revdb_denotes r v then want_commit r v t a
-    else match (norm_base r (fst v), snd v) with
-         | (BBranch b, []) =>                         (* dirty branch: `db/branch` is the branch's working set *)
-           match branch_working r b with
-           | Some w => match assoc t (d_schema w) with
-                       | Some cols => ans_eqb a (ARows cols (rows_of t (d_data w)))
-                       | None => is_error a
-                       end
-           | None => is_error a
-           end
-         | _ => match a with ARows _ _ | AHist _ _ => want_commit r v t a | _ => true end   (* refusing is fine; rows must be the right ones *)
-         end
-     if revdb_denotes r v then want_commit r v t a
-    else match (norm_base r (fst v), snd v) with
-         | (BBranch b, []) =>                         (* dirty branch: `db/branch` is the branch's working set *)
-           match branch_working r b with
-           | Some w => match assoc t (d_schema w) with
-                       | Some cols => ans_eqb a (ARows cols (rows_of t (d_data w)))
-                       | None => is_error a
-                       end
-           | None => is_error a
-           end
-         | _ => match a with ARows _ _ | AHist _ _ => want_commit r v t a | _ => true end   (* refusing is fine; rows must be the right ones *)
-         end
-=    if revdb_denotes r v then want_commit r v t a
-    else match (norm_base r (fst v), snd v) with
-         | (BBranch b, []) =>                         (* dirty branch: `db/branch` is the branch's working set *)
-           match branch_working r b with
-           | Some w => match assoc t (d_schema w) with
-                       | Some cols => ans_eqb a (ARows cols (rows_of t (d_data w)))
-                       | None => is_error a
-                       end
-           | None => is_error a
-           end
-         | _ => match a with ARows _ _ | AHist _ _ => want_commit r v t a | _ => true end   (* refusing is fine; rows must be the right ones *)
-         end
->    if revdb_denotes r v then want_commit r v t a
-    else match (norm_base r (fst v), snd v) with
-         | (BBranch b, []) =>                         (* dirty branch: `db/branch` is the branch's working set *)
-           match branch_working r b with
-           | Some w => match assoc t (d_schema w) with
-                       | Some cols => ans_eqb a (ARows cols (rows_of t (d_data w)))
-                       | None => is_error a
-                       end
-           | None => is_error a
-           end
-         | _ => match a with ARows _ _ | AHist _ _ => want_commit r v t a | _ => true end   (* refusing is fine; rows must be the right ones *)
-         end
-     if revdb_denotes r v then want_commit r v t a
-    else match (norm_base r (fst v), snd v) with
-         | (BBranch b, []) =>                         (* dirty branch: `db/branch` is the branch's working set *)
-           match branch_working r b with
-           | Some w => match assoc t (d_schema w) with
-                       | Some cols => ans_eqb a (ARows cols (rows_of t (d_data w)))
-                       | None => is_error a
-                       end
-           | None => is_error a
-           end
-         | _ => match a with ARows _ _ | AHist _ _ => want_commit r v t a | _ => true end   (* refusing is fine; rows must be the right ones *)
-         end
-r    if revdb_denotes r v then want_commit r v t a
-    else match (norm_base r (fst v), snd v) with
-         | (BBranch b, []) =>                         (* dirty branch: `db/branch` is the branch's working set *)
-           match branch_working r b with
-           | Some w => match assoc t (d_schema w) with
-                       | Some cols => ans_eqb a (ARows cols (rows_of t (d_data w)))
-                       | None => is_error a
-                       end
-           | None => is_error a
-           end
-         | _ => match a with ARows _ _ | AHist _ _ => want_commit r v t a | _ => true end   (* refusing is fine; rows must be the right ones *)
-         end
-e    if revdb_denotes r v then want_commit r v t a
-    else match (norm_base r (fst v), snd v) with
-         | (BBranch b, []) =>                         (* dirty branch: `db/branch` is the branch's working set *)
-           match branch_working r b with
-           | Some w => match assoc t (d_schema w) with
-                       | Some cols => ans_eqb a (ARows cols (rows_of t (d_data w)))
-                       | None => is_error a
-                       end
-           | None => is_error a
-           end
-         | _ => match a with ARows _ _ | AHist _ _ => want_commit r v t a | _ => true end   (* refusing is fine; rows must be the right ones *)
-         end
-v    if revdb_denotes r v then want_commit r v t a
-    else match (norm_base r (fst v), snd v) with
-         | (BBranch b, []) =>                         (* dirty branch: `db/branch` is the branch's working set *)
-           match branch_working r b with
-           | Some w => match assoc t (d_schema w) with
-                       | Some cols => ans_eqb a (ARows cols (rows_of t (d_data w)))
-                       | None => is_error a
-                       end
-           | None => is_error a
-           end
-         | _ => match a with ARows _ _ | AHist _ _ => want_commit r v t a | _ => true end   (* refusing is fine; rows must be the right ones *)
-         end
-d    if revdb_denotes r v then want_commit r v t a
-    else match (norm_base r (fst v), snd v) with
-         | (BBranch b, []) =>                         (* dirty branch: `db/branch` is the branch's working set *)
-           match branch_working r b with
-           | Some w => match assoc t (d_schema w) with
-                       | Some cols => ans_eqb a (ARows cols (rows_of t (d_data w)))
-                       | None => is_error a
-                       end
-           | None => is_error a
-           end
-         | _ => match a with ARows _ _ | AHist _ _ => want_commit r v t a | _ => true end   (* refusing is fine; rows must be the right ones *)
-         end
-b    if revdb_denotes r v then want_commit r v t a
-    else match (norm_base r (fst v), snd v) with
-         | (BBranch b, []) =>                         (* dirty branch: `db/branch` is the branch's working set *)
-           match branch_working r b with
-           | Some w => match assoc t (d_schema w) with
-                       | Some cols => ans_eqb a (ARows cols (rows_of t (d_data w)))
-                       | None => is_error a
-                       end
-           | None => is_error a
-           end
-         | _ => match a with ARows _ _ | AHist _ _ => want_commit r v t a | _ => true end   (* refusing is fine; rows must be the right ones *)
-         end
-     if revdb_denotes r v then want_commit r v t a
-    else match (norm_base r (fst v), snd v) with
-         | (BBranch b, []) =>                         (* dirty branch: `db/branch` is the branch's working set *)
-           match branch_working r b with
-           | Some w => match assoc t (d_schema w) with
-                       | Some cols => ans_eqb a (ARows cols (rows_of t (d_data w)))
-                       | None => is_error a
-                       end
-           | None => is_error a
-           end
-         | _ => match a with ARows _ _ | AHist _ _ => want_commit r v t a | _ => true end   (* refusing is fine; rows must be the right ones *)
-         end
-r    if revdb_denotes r v then want_commit r v t a
-    else match (norm_base r (fst v), snd v) with
-         | (BBranch b, []) =>                         (* dirty branch: `db/branch` is the branch's working set *)
-           match branch_working r b with
-           | Some w => match assoc t (d_schema w) with
-                       | Some cols => ans_eqb a (ARows cols (rows_of t (d_data w)))
-                       | None => is_error a
-                       end
-           | None => is_error a
-           end
-         | _ => match a with ARows _ _ | AHist _ _ => want_commit r v t a | _ => true end   (* refusing is fine; rows must be the right ones *)
-         end
-     if revdb_denotes r v then want_commit r v t a
-    else match (norm_base r (fst v), snd v) with
-         | (BBranch b, []) =>                         (* dirty branch: `db/branch` is the branch's working set *)
-           match branch_working r b with
-           | Some w => match assoc t (d_schema w) with
-                       | Some cols => ans_eqb a (ARows cols (rows_of t (d_data w)))
-                       | None => is_error a
-                       end
-           | None => is_error a
-           end
-         | _ => match a with ARows _ _ | AHist _ _ => want_commit r v t a | _ => true end   (* refusing is fine; rows must be the right ones *)
-         end
-v    if revdb_denotes r v then want_commit r v t a
-    else match (norm_base r (fst v), snd v) with
-         | (BBranch b, []) =>                         (* dirty branch: `db/branch` is the branch's working set *)
-           match branch_working r b with
-           | Some w => match assoc t (d_schema w) with
-                       | Some cols => ans_eqb a (ARows cols (rows_of t (d_data w)))
-                       | None => is_error a
-                       end
-           | None => is_error a
-           end
-         | _ => match a with ARows _ _ | AHist _ _ => want_commit r v t a | _ => true end   (* refusing is fine; rows must be the right ones *)
-         end
-     if revdb_denotes r v then want_commit r v t a
-    else match (norm_base r (fst v), snd v) with
-         | (BBranch b, []) =>                         (* dirty branch: `db/branch` is the branch's working set *)
-           match branch_working r b with
-           | Some w => match assoc t (d_schema w) with
-                       | Some cols => ans_eqb a (ARows cols (rows_of t (d_data w)))
-                       | None => is_error a
-                       end
-           | None => is_error a
-           end
-         | _ => match a with ARows _ _ | AHist _ _ => want_commit r v t a | _ => true end   (* refusing is fine; rows must be the right ones *)
-         end
-t    if revdb_denotes r v then want_commit r v t a
-    else match (norm_base r (fst v), snd v) with
-         | (BBranch b, []) =>                         (* dirty branch: `db/branch` is the branch's working set *)
-           match branch_working r b with
-           | Some w => match assoc t (d_schema w) with
-                       | Some cols => ans_eqb a (ARows cols (rows_of t (d_data w)))
-                       | None => is_error a
-                       end
-           | None => is_error a
-           end
-         | _ => match a with ARows _ _ | AHist _ _ => want_commit r v t a | _ => true end   (* refusing is fine; rows must be the right ones *)
-         end
-
-    if revdb_denotes r v then want_commit r v t a
-    else match (norm_base r (fst v), snd v) with
-         | (BBranch b, []) =>                         (* dirty branch: `db/branch` is the branch's working set *)
-           match branch_working r b with
-           | Some w => match assoc t (d_schema w) with
-                       | Some cols => ans_eqb a (ARows cols (rows_of t (d_data w)))
-                       | None => is_error a
-                       end
-           | None => is_error a
-           end
-         | _ => match a with ARows _ _ | AHist _ _ => want_commit r v t a | _ => true end   (* refusing is fine; rows must be the right ones *)
-         end
-     if revdb_denotes r v then want_commit r v t a
-    else match (norm_base r (fst v), snd v) with
-         | (BBranch b, []) =>                         (* dirty branch: `db/branch` is the branch's working set *)
-           match branch_working r b with
-           | Some w => match assoc t (d_schema w) with
-                       | Some cols => ans_eqb a (ARows cols (rows_of t (d_data w)))
-                       | None => is_error a
-                       end
-           | None => is_error a
-           end
-         | _ => match a with ARows _ _ | AHist _ _ => want_commit r v t a | _ => true end   (* refusing is fine; rows must be the right ones *)
-         end
-     if revdb_denotes r v then want_commit r v t a
-    else match (norm_base r (fst v), snd v) with
-         | (BBranch b, []) =>                         (* dirty branch: `db/branch` is the branch's working set *)
-           match branch_working r b with
-           | Some w => match assoc t (d_schema w) with
-                       | Some cols => ans_eqb a (ARows cols (rows_of t (d_data w)))
-                       | None => is_error a
-                       end
-           | None => is_error a
-           end
-         | _ => match a with ARows _ _ | AHist _ _ => want_commit r v t a | _ => true end   (* refusing is fine; rows must be the right ones *)
-         end
-|    if revdb_denotes r v then want_commit r v t a
-    else match (norm_base r (fst v), snd v) with
-         | (BBranch b, []) =>                         (* dirty branch: `db/branch` is the branch's working set *)
-           match branch_working r b with
-           | Some w => match assoc t (d_schema w) with
-                       | Some cols => ans_eqb a (ARows cols (rows_of t (d_data w)))
-                       | None => is_error a
-                       end
-           | None => is_error a
-           end
-         | _ => match a with ARows _ _ | AHist _ _ => want_commit r v t a | _ => true end   (* refusing is fine; rows must be the right ones *)
-         end
-     if revdb_denotes r v then want_commit r v t a
-    else match (norm_base r (fst v), snd v) with
-         | (BBranch b, []) =>                         (* dirty branch: `db/branch` is the branch's working set *)
-           match branch_working r b with
-           | Some w => match assoc t (d_schema w) with
-                       | Some cols => ans_eqb a (ARows cols (rows_of t (d_data w)))
-                       | None => is_error a
-                       end
-           | None => is_error a
-           end
-         | _ => match a with ARows _ _ | AHist _ _ => want_commit r v t a | _ => true end   (* refusing is fine; rows must be the right ones *)
-         end
-Q    if revdb_denotes r v then want_commit r v t a
-    else match (norm_base r (fst v), snd v) with
-         | (BBranch b, []) =>                         (* dirty branch: `db/branch` is the branch's working set *)
-           match branch_working r b with
-           | Some w => match assoc t (d_schema w) with
-                       | Some cols => ans_eqb a (ARows cols (rows_of t (d_data w)))
-                       | None => is_error a
-                       end
-           | None => is_error a
-           end
-         | _ => match a with ARows _ _ | AHist _ _ => want_commit r v t a | _ => true end   (* refusing is fine; rows must be the right ones *)
-         end
-H    if revdb_denotes r v then want_commit r v t a
-    else match (norm_base r (fst v), snd v) with
-         | (BBranch b, []) =>                         (* dirty branch: `db/branch` is the branch's working set *)
-           match branch_working r b with
-           | Some w => match assoc t (d_schema w) with
-                       | Some cols => ans_eqb a (ARows cols (rows_of t (d_data w)))
-                       | None => is_error a
-                       end
-           | None => is_error a
-           end
-         | _ => match a with ARows _ _ | AHist _ _ => want_commit r v t a | _ => true end   (* refusing is fine; rows must be the right ones *)
-         end
-i    if revdb_denotes r v then want_commit r v t a
-    else match (norm_base r (fst v), snd v) with
-         | (BBranch b, []) =>                         (* dirty branch: `db/branch` is the branch's working set *)
-           match branch_working r b with
-           | Some w => match assoc t (d_schema w) with
-                       | Some cols => ans_eqb a (ARows cols (rows_of t (d_data w)))
-                       | None => is_error a
-                       end
-           | None => is_error a
-           end
-         | _ => match a with ARows _ _ | AHist _ _ => want_commit r v t a | _ => true end   (* refusing is fine; rows must be the right ones *)
-         end
-s    if revdb_denotes r v then want_commit r v t a
-    else match (norm_base r (fst v), snd v) with
-         | (BBranch b, []) =>                         (* dirty branch: `db/branch` is the branch's working set *)
-           match branch_working r b with
-           | Some w => match assoc t (d_schema w) with
-                       | Some cols => ans_eqb a (ARows cols (rows_of t (d_data w)))
-                       | None => is_error a
-                       end
-           | None => is_error a
-           end
-         | _ => match a with ARows _ _ | AHist _ _ => want_commit r v t a | _ => true end   (* refusing is fine; rows must be the right ones *)
-         end
-t    if revdb_denotes r v then want_commit r v t a
-    else match (norm_base r (fst v), snd v) with
-         | (BBranch b, []) =>                         (* dirty branch: `db/branch` is the branch's working set *)
-           match branch_working r b with
-           | Some w => match assoc t (d_schema w) with
-                       | Some cols => ans_eqb a (ARows cols (rows_of t (d_data w)))
-                       | None => is_error a
-                       end
-           | None => is_error a
-           end
-         | _ => match a with ARows _ _ | AHist _ _ => want_commit r v t a | _ => true end   (* refusing is fine; rows must be the right ones *)
-         end
-A    if revdb_denotes r v then want_commit r v t a
-    else match (norm_base r (fst v), snd v) with
-         | (BBranch b, []) =>                         (* dirty branch: `db/branch` is the branch's working set *)
-           match branch_working r b with
-           | Some w => match assoc t (d_schema w) with
-                       | Some cols => ans_eqb a (ARows cols (rows_of t (d_data w)))
-                       | None => is_error a
-                       end
-           | None => is_error a
-           end
-         | _ => match a with ARows _ _ | AHist _ _ => want_commit r v t a | _ => true end   (* refusing is fine; rows must be the right ones *)
-         end
-t    if revdb_denotes r v then want_commit r v t a
-    else match (norm_base r (fst v), snd v) with
-         | (BBranch b, []) =>                         (* dirty branch: `db/branch` is the branch's working set *)
-           match branch_working r b with
-           | Some w => match assoc t (d_schema w) with
-                       | Some cols => ans_eqb a (ARows cols (rows_of t (d_data w)))
-                       | None => is_error a
-                       end
-           | None => is_error a
-           end
-         | _ => match a with ARows _ _ | AHist _ _ => want_commit r v t a | _ => true end   (* refusing is fine; rows must be the right ones *)
-         end
-     if revdb_denotes r v then want_commit r v t a
-    else match (norm_base r (fst v), snd v) with
-         | (BBranch b, []) =>                         (* dirty branch: `db/branch` is the branch's working set *)
-           match branch_working r b with
-           | Some w => match assoc t (d_schema w) with
-                       | Some cols => ans_eqb a (ARows cols (rows_of t (d_data w)))
-                       | None => is_error a
-                       end
-           | None => is_error a
-           end
-         | _ => match a with ARows _ _ | AHist _ _ => want_commit r v t a | _ => true end   (* refusing is fine; rows must be the right ones *)
-         end
-c    if revdb_denotes r v then want_commit r v t a
-    else match (norm_base r (fst v), snd v) with
-         | (BBranch b, []) =>                         (* dirty branch: `db/branch` is the branch's working set *)
-           match branch_working r b with
-           | Some w => match assoc t (d_schema w) with
-                       | Some cols => ans_eqb a (ARows cols (rows_of t (d_data w)))
-                       | None => is_error a
-                       end
-           | None => is_error a
-           end
-         | _ => match a with ARows _ _ | AHist _ _ => want_commit r v t a | _ => true end   (* refusing is fine; rows must be the right ones *)
-         end
-     if revdb_denotes r v then want_commit r v t a
-    else match (norm_base r (fst v), snd v) with
-         | (BBranch b, []) =>                         (* dirty branch: `db/branch` is the branch's working set *)
-           match branch_working r b with
-           | Some w => match assoc t (d_schema w) with
-                       | Some cols => ans_eqb a (ARows cols (rows_of t (d_data w)))
-                       | None => is_error a
-                       end
-           | None => is_error a
-           end
-         | _ => match a with ARows _ _ | AHist _ _ => want_commit r v t a | _ => true end   (* refusing is fine; rows must be the right ones *)
-         end
-t    if revdb_denotes r v then want_commit r v t a
-    else match (norm_base r (fst v), snd v) with
-         | (BBranch b, []) =>                         (* dirty branch: `db/branch` is the branch's working set *)
-           match branch_working r b with
-           | Some w => match assoc t (d_schema w) with
-                       | Some cols => ans_eqb a (ARows cols (rows_of t (d_data w)))
-                       | None => is_error a
-                       end
-           | None => is_error a
-           end
-         | _ => match a with ARows _ _ | AHist _ _ => want_commit r v t a | _ => true end   (* refusing is fine; rows must be the right ones *)
-         end
-     if revdb_denotes r v then want_commit r v t a
-    else match (norm_base r (fst v), snd v) with
-         | (BBranch b, []) =>                         (* dirty branch: `db/branch` is the branch's working set *)
-           match branch_working r b with
-           | Some w => match assoc t (d_schema w) with
-                       | Some cols => ans_eqb a (ARows cols (rows_of t (d_data w)))
-                       | None => is_error a
-                       end
-           | None => is_error a
-           end
-         | _ => match a with ARows _ _ | AHist _ _ => want_commit r v t a | _ => true end   (* refusing is fine; rows must be the right ones *)
-         end
-=    if revdb_denotes r v then want_commit r v t a
-    else match (norm_base r (fst v), snd v) with
-         | (BBranch b, []) =>                         (* dirty branch: `db/branch` is the branch's working set *)
-           match branch_working r b with
-           | Some w => match assoc t (d_schema w) with
-                       | Some cols => ans_eqb a (ARows cols (rows_of t (d_data w)))
-                       | None => is_error a
-                       end
-           | None => is_error a
-           end
-         | _ => match a with ARows _ _ | AHist _ _ => want_commit r v t a | _ => true end   (* refusing is fine; rows must be the right ones *)
-         end
->    if revdb_denotes r v then want_commit r v t a
-    else match (norm_base r (fst v), snd v) with
-         | (BBranch b, []) =>                         (* dirty branch: `db/branch` is the branch's working set *)
-           match branch_working r b with
-           | Some w => match assoc t (d_schema w) with
-                       | Some cols => ans_eqb a (ARows cols (rows_of t (d_data w)))
-                       | None => is_error a
-                       end
-           | None => is_error a
-           end
-         | _ => match a with ARows _ _ | AHist _ _ => want_commit r v t a | _ => true end   (* refusing is fine; rows must be the right ones *)
-         end
-     if revdb_denotes r v then want_commit r v t a
-    else match (norm_base r (fst v), snd v) with
-         | (BBranch b, []) =>                         (* dirty branch: `db/branch` is the branch's working set *)
-           match branch_working r b with
-           | Some w => match assoc t (d_schema w) with
-                       | Some cols => ans_eqb a (ARows cols (rows_of t (d_data w)))
-                       | None => is_error a
-                       end
-           | None => is_error a
-           end
-         | _ => match a with ARows _ _ | AHist _ _ => want_commit r v t a | _ => true end   (* refusing is fine; rows must be the right ones *)
-         end
-h    if revdb_denotes r v then want_commit r v t a
-    else match (norm_base r (fst v), snd v) with
-         | (BBranch b, []) =>                         (* dirty branch: `db/branch` is the branch's working set *)
-           match branch_working r b with
-           | Some w => match assoc t (d_schema w) with
-                       | Some cols => ans_eqb a (ARows cols (rows_of t (d_data w)))
-                       | None => is_error a
-                       end
-           | None => is_error a
-           end
-         | _ => match a with ARows _ _ | AHist _ _ => want_commit r v t a | _ => true end   (* refusing is fine; rows must be the right ones *)
-         end
-i    if revdb_denotes r v then want_commit r v t a
-    else match (norm_base r (fst v), snd v) with
-         | (BBranch b, []) =>                         (* dirty branch: `db/branch` is the branch's working set *)
-           match branch_working r b with
-           | Some w => match assoc t (d_schema w) with
-                       | Some cols => ans_eqb a (ARows cols (rows_of t (d_data w)))
-                       | None => is_error a
-                       end
-           | None => is_error a
-           end
-         | _ => match a with ARows _ _ | AHist _ _ => want_commit r v t a | _ => true end   (* refusing is fine; rows must be the right ones *)
-         end
-s    if revdb_denotes r v then want_commit r v t a
-    else match (norm_base r (fst v), snd v) with
-         | (BBranch b, []) =>                         (* dirty branch: `db/branch` is the branch's working set *)
-           match branch_working r b with
-           | Some w => match assoc t (d_schema w) with
-                       | Some cols => ans_eqb a (ARows cols (rows_of t (d_data w)))
-                       | None => is_error a
-                       end
-           | None => is_error a
-           end
-         | _ => match a with ARows _ _ | AHist _ _ => want_commit r v t a | _ => true end   (* refusing is fine; rows must be the right ones *)
-         end
-t    if revdb_denotes r v then want_commit r v t a
-    else match (norm_base r (fst v), snd v) with
-         | (BBranch b, []) =>                         (* dirty branch: `db/branch` is the branch's working set *)
-           match branch_working r b with
-           | Some w => match assoc t (d_schema w) with
-                       | Some cols => ans_eqb a (ARows cols (rows_of t (d_data w)))
-                       | None => is_error a
-                       end
-           | None => is_error a
-           end
-         | _ => match a with ARows _ _ | AHist _ _ => want_commit r v t a | _ => true end   (* refusing is fine; rows must be the right ones *)
-         end
-_    if revdb_denotes r v then want_commit r v t a
-    else match (norm_base r (fst v), snd v) with
-         | (BBranch b, []) =>                         (* dirty branch: `db/branch` is the branch's working set *)
-           match branch_working r b with
-           | Some w => match assoc t (d_schema w) with
-                       | Some cols => ans_eqb a (ARows cols (rows_of t (d_data w)))
-                       | None => is_error a
-                       end
-           | None => is_error a
-           end
-         | _ => match a with ARows _ _ | AHist _ _ => want_commit r v t a | _ => true end   (* refusing is fine; rows must be the right ones *)
-         end
-a    if revdb_denotes r v then want_commit r v t a
-    else match (norm_base r (fst v), snd v) with
-         | (BBranch b, []) =>                         (* dirty branch: `db/branch` is the branch's working set *)
-           match branch_working r b with
-           | Some w => match assoc t (d_schema w) with
-                       | Some cols => ans_eqb a (ARows cols (rows_of t (d_data w)))
-                       | None => is_error a
-                       end
-           | None => is_error a
-           end
-         | _ => match a with ARows _ _ | AHist _ _ => want_commit r v t a | _ => true end   (* refusing is fine; rows must be the right ones *)
-         end
-t    if revdb_denotes r v then want_commit r v t a
-    else match (norm_base r (fst v), snd v) with
-         | (BBranch b, []) =>                         (* dirty branch: `db/branch` is the branch's working set *)
-           match branch_working r b with
-           | Some w => match assoc t (d_schema w) with
-                       | Some cols => ans_eqb a (ARows cols (rows_of t (d_data w)))
-                       | None => is_error a
-                       end
-           | None => is_error a
-           end
-         | _ => match a with ARows _ _ | AHist _ _ => want_commit r v t a | _ => true end   (* refusing is fine; rows must be the right ones *)
-         end
-     if revdb_denotes r v then want_commit r v t a
-    else match (norm_base r (fst v), snd v) with
-         | (BBranch b, []) =>                         (* dirty branch: `db/branch` is the branch's working set *)
-           match branch_working r b with
-           | Some w => match assoc t (d_schema w) with
-                       | Some cols => ans_eqb a (ARows cols (rows_of t (d_data w)))
-                       | None => is_error a
-                       end
-           | None => is_error a
-           end
-         | _ => match a with ARows _ _ | AHist _ _ => want_commit r v t a | _ => true end   (* refusing is fine; rows must be the right ones *)
-         end
-r    if revdb_denotes r v then want_commit r v t a
-    else match (norm_base r (fst v), snd v) with
-         | (BBranch b, []) =>                         (* dirty branch: `db/branch` is the branch's working set *)
-           match branch_working r b with
-           | Some w => match assoc t (d_schema w) with
-                       | Some cols => ans_eqb a (ARows cols (rows_of t (d_data w)))
-                       | None => is_error a
-                       end
-           | None => is_error a
-           end
-         | _ => match a with ARows _ _ | AHist _ _ => want_commit r v t a | _ => true end   (* refusing is fine; rows must be the right ones *)
-         end
-     if revdb_denotes r v then want_commit r v t a
-    else match (norm_base r (fst v), snd v) with
-         | (BBranch b, []) =>                         (* dirty branch: `db/branch` is the branch's working set *)
-           match branch_working r b with
-           | Some w => match assoc t (d_schema w) with
-                       | Some cols => ans_eqb a (ARows cols (rows_of t (d_data w)))
-                       | None => is_error a
-                       end
-           | None => is_error a
-           end
-         | _ => match a with ARows _ _ | AHist _ _ => want_commit r v t a | _ => true end   (* refusing is fine; rows must be the right ones *)
-         end
-c    if revdb_denotes r v then want_commit r v t a
-    else match (norm_base r (fst v), snd v) with
-         | (BBranch b, []) =>                         (* dirty branch: `db/branch` is the branch's working set *)
-           match branch_working r b with
-           | Some w => match assoc t (d_schema w) with
-                       | Some cols => ans_eqb a (ARows cols (rows_of t (d_data w)))
-                       | None => is_error a
-                       end
-           | None => is_error a
-           end
-         | _ => match a with ARows _ _ | AHist _ _ => want_commit r v t a | _ => true end   (* refusing is fine; rows must be the right ones *)
-         end
-     if revdb_denotes r v then want_commit r v t a
-    else match (norm_base r (fst v), snd v) with
-         | (BBranch b, []) =>                         (* dirty branch: `db/branch` is the branch's working set *)
-           match branch_working r b with
-           | Some w => match assoc t (d_schema w) with
-                       | Some cols => ans_eqb a (ARows cols (rows_of t (d_data w)))
-                       | None => is_error a
-                       end
-           | None => is_error a
-           end
-         | _ => match a with ARows _ _ | AHist _ _ => want_commit r v t a | _ => true end   (* refusing is fine; rows must be the right ones *)
-         end
-t    if revdb_denotes r v then want_commit r v t a
-    else match (norm_base r (fst v), snd v) with
-         | (BBranch b, []) =>                         (* dirty branch: `db/branch` is the branch's working set *)
-           match branch_working r b with
-           | Some w => match assoc t (d_schema w) with
-                       | Some cols => ans_eqb a (ARows cols (rows_of t (d_data w)))
-                       | None => is_error a
-                       end
-           | None => is_error a
-           end
-         | _ => match a with ARows _ _ | AHist _ _ => want_commit r v t a | _ => true end   (* refusing is fine; rows must be the right ones *)
-         end
-
-    if revdb_denotes r v then want_commit r v t a
-    else match (norm_base r (fst v), snd v) with
-         | (BBranch b, []) =>                         (* dirty branch: `db/branch` is the branch's working set *)
-           match branch_working r b with
-           | Some w => match assoc t (d_schema w) with
-                       | Some cols => ans_eqb a (ARows cols (rows_of t (d_data w)))
-                       | None => is_error a
-                       end
-           | None => is_error a
-           end
-         | _ => match a with ARows _ _ | AHist _ _ => want_commit r v t a | _ => true end   (* refusing is fine; rows must be the right ones *)
-         end
-     if revdb_denotes r v then want_commit r v t a
-    else match (norm_base r (fst v), snd v) with
-         | (BBranch b, []) =>                         (* dirty branch: `db/branch` is the branch's working set *)
-           match branch_working r b with
-           | Some w => match assoc t (d_schema w) with
-                       | Some cols => ans_eqb a (ARows cols (rows_of t (d_data w)))
-                       | None => is_error a
-                       end
-           | None => is_error a
-           end
-         | _ => match a with ARows _ _ | AHist _ _ => want_commit r v t a | _ => true end   (* refusing is fine; rows must be the right ones *)
-         end
-     if revdb_denotes r v then want_commit r v t a
-    else match (norm_base r (fst v), snd v) with
-         | (BBranch b, []) =>                         (* dirty branch: `db/branch` is the branch's working set *)
-           match branch_working r b with
-           | Some w => match assoc t (d_schema w) with
-                       | Some cols => ans_eqb a (ARows cols (rows_of t (d_data w)))
-                       | None => is_error a
-                       end
-           | None => is_error a
-           end
-         | _ => match a with ARows _ _ | AHist _ _ => want_commit r v t a | _ => true end   (* refusing is fine; rows must be the right ones *)
-         end
-|    if revdb_denotes r v then want_commit r v t a
-    else match (norm_base r (fst v), snd v) with
-         | (BBranch b, []) =>                         (* dirty branch: `db/branch` is the branch's working set *)
-           match branch_working r b with
-           | Some w => match assoc t (d_schema w) with
-                       | Some cols => ans_eqb a (ARows cols (rows_of t (d_data w)))
-                       | None => is_error a
-                       end
-           | None => is_error a
-           end
-         | _ => match a with ARows _ _ | AHist _ _ => want_commit r v t a | _ => true end   (* refusing is fine; rows must be the right ones *)
-         end
-     if revdb_denotes r v then want_commit r v t a
-    else match (norm_base r (fst v), snd v) with
-         | (BBranch b, []) =>                         (* dirty branch: `db/branch` is the branch's working set *)
-           match branch_working r b with
-           | Some w => match assoc t (d_schema w) with
-                       | Some cols => ans_eqb a (ARows cols (rows_of t (d_data w)))
-                       | None => is_error a
-                       end
-           | None => is_error a
-           end
-         | _ => match a with ARows _ _ | AHist _ _ => want_commit r v t a | _ => true end   (* refusing is fine; rows must be the right ones *)
-         end
-Q    if revdb_denotes r v then want_commit r v t a
-    else match (norm_base r (fst v), snd v) with
-         | (BBranch b, []) =>                         (* dirty branch: `db/branch` is the branch's working set *)
-           match branch_working r b with
-           | Some w => match assoc t (d_schema w) with
-                       | Some cols => ans_eqb a (ARows cols (rows_of t (d_data w)))
-                       | None => is_error a
-                       end
-           | None => is_error a
-           end
-         | _ => match a with ARows _ _ | AHist _ _ => want_commit r v t a | _ => true end   (* refusing is fine; rows must be the right ones *)
-         end
-H    if revdb_denotes r v then want_commit r v t a
-    else match (norm_base r (fst v), snd v) with
-         | (BBranch b, []) =>                         (* dirty branch: `db/branch` is the branch's working set *)
-           match branch_working r b with
-           | Some w => match assoc t (d_schema w) with
-                       | Some cols => ans_eqb a (ARows cols (rows_of t (d_data w)))
-                       | None => is_error a
-                       end
-           | None => is_error a
-           end
-         | _ => match a with ARows _ _ | AHist _ _ => want_commit r v t a | _ => true end   (* refusing is fine; rows must be the right ones *)
-         end
-i    if revdb_denotes r v then want_commit r v t a
-    else match (norm_base r (fst v), snd v) with
-         | (BBranch b, []) =>                         (* dirty branch: `db/branch` is the branch's working set *)
-           match branch_working r b with
-           | Some w => match assoc t (d_schema w) with
-                       | Some cols => ans_eqb a (ARows cols (rows_of t (d_data w)))
-                       | None => is_error a
-                       end
-           | None => is_error a
-           end
-         | _ => match a with ARows _ _ | AHist _ _ => want_commit r v t a | _ => true end   (* refusing is fine; rows must be the right ones *)
-         end
-s    if revdb_denotes r v then want_commit r v t a
-    else match (norm_base r (fst v), snd v) with
-         | (BBranch b, []) =>                         (* dirty branch: `db/branch` is the branch's working set *)
-           match branch_working r b with
-           | Some w => match assoc t (d_schema w) with
-                       | Some cols => ans_eqb a (ARows cols (rows_of t (d_data w)))
-                       | None => is_error a
-                       end
-           | None => is_error a
-           end
-         | _ => match a with ARows _ _ | AHist _ _ => want_commit r v t a | _ => true end   (* refusing is fine; rows must be the right ones *)
-         end
-t    if revdb_denotes r v then want_commit r v t a
-    else match (norm_base r (fst v), snd v) with
-         | (BBranch b, []) =>                         (* dirty branch: `db/branch` is the branch's working set *)
-           match branch_working r b with
-           | Some w => match assoc t (d_schema w) with
-                       | Some cols => ans_eqb a (ARows cols (rows_of t (d_data w)))
-                       | None => is_error a
-                       end
-           | None => is_error a
-           end
-         | _ => match a with ARows _ _ | AHist _ _ => want_commit r v t a | _ => true end   (* refusing is fine; rows must be the right ones *)
-         end
-A    if revdb_denotes r v then want_commit r v t a
-    else match (norm_base r (fst v), snd v) with
-         | (BBranch b, []) =>                         (* dirty branch: `db/branch` is the branch's working set *)
-           match branch_working r b with
-           | Some w => match assoc t (d_schema w) with
-                       | Some cols => ans_eqb a (ARows cols (rows_of t (d_data w)))
-                       | None => is_error a
-                       end
-           | None => is_error a
-           end
-         | _ => match a with ARows _ _ | AHist _ _ => want_commit r v t a | _ => true end   (* refusing is fine; rows must be the right ones *)
-         end
-l    if revdb_denotes r v then want_commit r v t a
-    else match (norm_base r (fst v), snd v) with
-         | (BBranch b, []) =>                         (* dirty branch: `db/branch` is the branch's working set *)
-           match branch_working r b with
-           | Some w => match assoc t (d_schema w) with
-                       | Some cols => ans_eqb a (ARows cols (rows_of t (d_data w)))
-                       | None => is_error a
-                       end
-           | None => is_error a
-           end
-         | _ => match a with ARows _ _ | AHist _ _ => want_commit r v t a | _ => true end   (* refusing is fine; rows must be the right ones *)
-         end
-l    if revdb_denotes r v then want_commit r v t a
-    else match (norm_base r (fst v), snd v) with
-         | (BBranch b, []) =>                         (* dirty branch: `db/branch` is the branch's working set *)
-           match branch_working r b with
-           | Some w => match assoc t (d_schema w) with
-                       | Some cols => ans_eqb a (ARows cols (rows_of t (d_data w)))
-                       | None => is_error a
-                       end
-           | None => is_error a
-           end
-         | _ => match a with ARows _ _ | AHist _ _ => want_commit r v t a | _ => true end   (* refusing is fine; rows must be the right ones *)
-         end
-     if revdb_denotes r v then want_commit r v t a
-    else match (norm_base r (fst v), snd v) with
-         | (BBranch b, []) =>                         (* dirty branch: `db/branch` is the branch's working set *)
-           match branch_working r b with
-           | Some w => match assoc t (d_schema w) with
-                       | Some cols => ans_eqb a (ARows cols (rows_of t (d_data w)))
-                       | None => is_error a
-                       end
-           | None => is_error a
-           end
-         | _ => match a with ARows _ _ | AHist _ _ => want_commit r v t a | _ => true end   (* refusing is fine; rows must be the right ones *)
-         end
-t    if revdb_denotes r v then want_commit r v t a
-    else match (norm_base r (fst v), snd v) with
-         | (BBranch b, []) =>                         (* dirty branch: `db/branch` is the branch's working set *)
-           match branch_working r b with
-           | Some w => match assoc t (d_schema w) with
-                       | Some cols => ans_eqb a (ARows cols (rows_of t (d_data w)))
-                       | None => is_error a
-                       end
-           | None => is_error a
-           end
-         | _ => match a with ARows _ _ | AHist _ _ => want_commit r v t a | _ => true end   (* refusing is fine; rows must be the right ones *)
-         end
-     if revdb_denotes r v then want_commit r v t a
-    else match (norm_base r (fst v), snd v) with
-         | (BBranch b, []) =>                         (* dirty branch: `db/branch` is the branch's working set *)
-           match branch_working r b with
-           | Some w => match assoc t (d_schema w) with
-                       | Some cols => ans_eqb a (ARows cols (rows_of t (d_data w)))
-                       | None => is_error a
-                       end
-           | None => is_error a
-           end
-         | _ => match a with ARows _ _ | AHist _ _ => want_commit r v t a | _ => true end   (* refusing is fine; rows must be the right ones *)
-         end
-=    if revdb_denotes r v then want_commit r v t a
-    else match (norm_base r (fst v), snd v) with
-         | (BBranch b, []) =>                         (* dirty branch: `db/branch` is the branch's working set *)
-           match branch_working r b with
-           | Some w => match assoc t (d_schema w) with
-                       | Some cols => ans_eqb a (ARows cols (rows_of t (d_data w)))
-                       | None => is_error a
-                       end
-           | None => is_error a
-           end
-         | _ => match a with ARows _ _ | AHist _ _ => want_commit r v t a | _ => true end   (* refusing is fine; rows must be the right ones *)
-         end
->    if revdb_denotes r v then want_commit r v t a
-    else match (norm_base r (fst v), snd v) with
-         | (BBranch b, []) =>                         (* dirty branch: `db/branch` is the branch's working set *)
-           match branch_working r b with
-           | Some w => match assoc t (d_schema w) with
-                       | Some cols => ans_eqb a (ARows cols (rows_of t (d_data w)))
-                       | None => is_error a
-                       end
-           | None => is_error a
-           end
-         | _ => match a with ARows _ _ | AHist _ _ => want_commit r v t a | _ => true end   (* refusing is fine; rows must be the right ones *)
-         end
-     if revdb_denotes r v then want_commit r v t a
-    else match (norm_base r (fst v), snd v) with
-         | (BBranch b, []) =>                         (* dirty branch: `db/branch` is the branch's working set *)
-           match branch_working r b with
-           | Some w => match assoc t (d_schema w) with
-                       | Some cols => ans_eqb a (ARows cols (rows_of t (d_data w)))
-                       | None => is_error a
-                       end
-           | None => is_error a
-           end
-         | _ => match a with ARows _ _ | AHist _ _ => want_commit r v t a | _ => true end   (* refusing is fine; rows must be the right ones *)
-         end
-h    if revdb_denotes r v then want_commit r v t a
-    else match (norm_base r (fst v), snd v) with
-         | (BBranch b, []) =>                         (* dirty branch: `db/branch` is the branch's working set *)
-           match branch_working r b with
-           | Some w => match assoc t (d_schema w) with
-                       | Some cols => ans_eqb a (ARows cols (rows_of t (d_data w)))
-                       | None => is_error a
-                       end
-           | None => is_error a
-           end
-         | _ => match a with ARows _ _ | AHist _ _ => want_commit r v t a | _ => true end   (* refusing is fine; rows must be the right ones *)
-         end
-i    if revdb_denotes r v then want_commit r v t a
-    else match (norm_base r (fst v), snd v) with
-         | (BBranch b, []) =>                         (* dirty branch: `db/branch` is the branch's working set *)
-           match branch_working r b with
-           | Some w => match assoc t (d_schema w) with
-                       | Some cols => ans_eqb a (ARows cols (rows_of t (d_data w)))
-                       | None => is_error a
-                       end
-           | None => is_error a
-           end
-         | _ => match a with ARows _ _ | AHist _ _ => want_commit r v t a | _ => true end   (* refusing is fine; rows must be the right ones *)
-         end
-s    if revdb_denotes r v then want_commit r v t a
-    else match (norm_base r (fst v), snd v) with
-         | (BBranch b, []) =>                         (* dirty branch: `db/branch` is the branch's working set *)
-           match branch_working r b with
-           | Some w => match assoc t (d_schema w) with
-                       | Some cols => ans_eqb a (ARows cols (rows_of t (d_data w)))
-                       | None => is_error a
-                       end
-           | None => is_error a
-           end
-         | _ => match a with ARows _ _ | AHist _ _ => want_commit r v t a | _ => true end   (* refusing is fine; rows must be the right ones *)
-         end
-t    if revdb_denotes r v then want_commit r v t a
-    else match (norm_base r (fst v), snd v) with
-         | (BBranch b, []) =>                         (* dirty branch: `db/branch` is the branch's working set *)
-           match branch_working r b with
-           | Some w => match assoc t (d_schema w) with
-                       | Some cols => ans_eqb a (ARows cols (rows_of t (d_data w)))
-                       | None => is_error a
-                       end
-           | None => is_error a
-           end
-         | _ => match a with ARows _ _ | AHist _ _ => want_commit r v t a | _ => true end   (* refusing is fine; rows must be the right ones *)
-         end
-_    if revdb_denotes r v then want_commit r v t a
-    else match (norm_base r (fst v), snd v) with
-         | (BBranch b, []) =>                         (* dirty branch: `db/branch` is the branch's working set *)
-           match branch_working r b with
-           | Some w => match assoc t (d_schema w) with
-                       | Some cols => ans_eqb a (ARows cols (rows_of t (d_data w)))
-                       | None => is_error a
-                       end
-           | None => is_error a
-           end
-         | _ => match a with ARows _ _ | AHist _ _ => want_commit r v t a | _ => true end   (* refusing is fine; rows must be the right ones *)
-         end
-a    if revdb_denotes r v then want_commit r v t a
-    else match (norm_base r (fst v), snd v) with
-         | (BBranch b, []) =>                         (* dirty branch: `db/branch` is the branch's working set *)
-           match branch_working r b with
-           | Some w => match assoc t (d_schema w) with
-                       | Some cols => ans_eqb a (ARows cols (rows_of t (d_data w)))
-                       | None => is_error a
-                       end
-           | None => is_error a
-           end
-         | _ => match a with ARows _ _ | AHist _ _ => want_commit r v t a | _ => true end   (* refusing is fine; rows must be the right ones *)
-         end
-l    if revdb_denotes r v then want_commit r v t a
-    else match (norm_base r (fst v), snd v) with
-         | (BBranch b, []) =>                         (* dirty branch: `db/branch` is the branch's working set *)
-           match branch_working r b with
-           | Some w => match assoc t (d_schema w) with
-                       | Some cols => ans_eqb a (ARows cols (rows_of t (d_data w)))
-                       | None => is_error a
-                       end
-           | None => is_error a
-           end
-         | _ => match a with ARows _ _ | AHist _ _ => want_commit r v t a | _ => true end   (* refusing is fine; rows must be the right ones *)
-         end
-l    if revdb_denotes r v then want_commit r v t a
-    else match (norm_base r (fst v), snd v) with
-         | (BBranch b, []) =>                         (* dirty branch: `db/branch` is the branch's working set *)
-           match branch_working r b with
-           | Some w => match assoc t (d_schema w) with
-                       | Some cols => ans_eqb a (ARows cols (rows_of t (d_data w)))
-                       | None => is_error a
-                       end
-           | None => is_error a
-           end
-         | _ => match a with ARows _ _ | AHist _ _ => want_commit r v t a | _ => true end   (* refusing is fine; rows must be the right ones *)
-         end
-     if revdb_denotes r v then want_commit r v t a
-    else match (norm_base r (fst v), snd v) with
-         | (BBranch b, []) =>                         (* dirty branch: `db/branch` is the branch's working set *)
-           match branch_working r b with
-           | Some w => match assoc t (d_schema w) with
-                       | Some cols => ans_eqb a (ARows cols (rows_of t (d_data w)))
-                       | None => is_error a
-                       end
-           | None => is_error a
-           end
-         | _ => match a with ARows _ _ | AHist _ _ => want_commit r v t a | _ => true end   (* refusing is fine; rows must be the right ones *)
-         end
-r    if revdb_denotes r v then want_commit r v t a
-    else match (norm_base r (fst v), snd v) with
-         | (BBranch b, []) =>                         (* dirty branch: `db/branch` is the branch's working set *)
-           match branch_working r b with
-           | Some w => match assoc t (d_schema w) with
-                       | Some cols => ans_eqb a (ARows cols (rows_of t (d_data w)))
-                       | None => is_error a
-                       end
-           | None => is_error a
-           end
-         | _ => match a with ARows _ _ | AHist _ _ => want_commit r v t a | _ => true end   (* refusing is fine; rows must be the right ones *)
-         end
-     if revdb_denotes r v then want_commit r v t a
-    else match (norm_base r (fst v), snd v) with
-         | (BBranch b, []) =>                         (* dirty branch: `db/branch` is the branch's working set *)
-           match branch_working r b with
-           | Some w => match assoc t (d_schema w) with
-                       | Some cols => ans_eqb a (ARows cols (rows_of t (d_data w)))
-                       | None => is_error a
-                       end
-           | None => is_error a
-           end
-         | _ => match a with ARows _ _ | AHist _ _ => want_commit r v t a | _ => true end   (* refusing is fine; rows must be the right ones *)
-         end
-t    if revdb_denotes r v then want_commit r v t a
-    else match (norm_base r (fst v), snd v) with
-         | (BBranch b, []) =>                         (* dirty branch: `db/branch` is the branch's working set *)
-           match branch_working r b with
-           | Some w => match assoc t (d_schema w) with
-                       | Some cols => ans_eqb a (ARows cols (rows_of t (d_data w)))
-                       | None => is_error a
-                       end
-           | None => is_error a
-           end
-         | _ => match a with ARows _ _ | AHist _ _ => want_commit r v t a | _ => true end   (* refusing is fine; rows must be the right ones *)
-         end
-
-    if revdb_denotes r v then want_commit r v t a
-    else match (norm_base r (fst v), snd v) with
-         | (BBranch b, []) =>                         (* dirty branch: `db/branch` is the branch's working set *)
-           match branch_working r b with
-           | Some w => match assoc t (d_schema w) with
-                       | Some cols => ans_eqb a (ARows cols (rows_of t (d_data w)))
-                       | None => is_error a
-                       end
-           | None => is_error a
-           end
-         | _ => match a with ARows _ _ | AHist _ _ => want_commit r v t a | _ => true end   (* refusing is fine; rows must be the right ones *)
-         end
-     if revdb_denotes r v then want_commit r v t a
-    else match (norm_base r (fst v), snd v) with
-         | (BBranch b, []) =>                         (* dirty branch: `db/branch` is the branch's working set *)
-           match branch_working r b with
-           | Some w => match assoc t (d_schema w) with
-                       | Some cols => ans_eqb a (ARows cols (rows_of t (d_data w)))
-                       | None => is_error a
-                       end
-           | None => is_error a
-           end
-         | _ => match a with ARows _ _ | AHist _ _ => want_commit r v t a | _ => true end   (* refusing is fine; rows must be the right ones *)
-         end
-     if revdb_denotes r v then want_commit r v t a
-    else match (norm_base r (fst v), snd v) with
-         | (BBranch b, []) =>                         (* dirty branch: `db/branch` is the branch's working set *)
-           match branch_working r b with
-           | Some w => match assoc t (d_schema w) with
-                       | Some cols => ans_eqb a (ARows cols (rows_of t (d_data w)))
-                       | None => is_error a
-                       end
-           | None => is_error a
-           end
-         | _ => match a with ARows _ _ | AHist _ _ => want_commit r v t a | _ => true end   (* refusing is fine; rows must be the right ones *)
-         end
-e    if revdb_denotes r v then want_commit r v t a
-    else match (norm_base r (fst v), snd v) with
-         | (BBranch b, []) =>                         (* dirty branch: `db/branch` is the branch's working set *)
-           match branch_working r b with
-           | Some w => match assoc t (d_schema w) with
-                       | Some cols => ans_eqb a (ARows cols (rows_of t (d_data w)))
-                       | None => is_error a
-                       end
-           | None => is_error a
-           end
-         | _ => match a with ARows _ _ | AHist _ _ => want_commit r v t a | _ => true end   (* refusing is fine; rows must be the right ones *)
-         end
-n    if revdb_denotes r v then want_commit r v t a
-    else match (norm_base r (fst v), snd v) with
-         | (BBranch b, []) =>                         (* dirty branch: `db/branch` is the branch's working set *)
-           match branch_working r b with
-           | Some w => match assoc t (d_schema w) with
-                       | Some cols => ans_eqb a (ARows cols (rows_of t (d_data w)))
-                       | None => is_error a
-                       end
-           | None => is_error a
-           end
-         | _ => match a with ARows _ _ | AHist _ _ => want_commit r v t a | _ => true end   (* refusing is fine; rows must be the right ones *)
-         end
-d    if revdb_denotes r v then want_commit r v t a
-    else match (norm_base r (fst v), snd v) with
-         | (BBranch b, []) =>                         (* dirty branch: `db/branch` is the branch's working set *)
-           match branch_working r b with
-           | Some w => match assoc t (d_schema w) with
-                       | Some cols => ans_eqb a (ARows cols (rows_of t (d_data w)))
-                       | None => is_error a
-                       end
-           | None => is_error a
-           end
-         | _ => match a with ARows _ _ | AHist _ _ => want_commit r v t a | _ => true end   (* refusing is fine; rows must be the right ones *)
-         end
-.    if revdb_denotes r v then want_commit r v t a
-    else match (norm_base r (fst v), snd v) with
-         | (BBranch b, []) =>                         (* dirty branch: `db/branch` is the branch's working set *)
-           match branch_working r b with
-           | Some w => match assoc t (d_schema w) with
-                       | Some cols => ans_eqb a (ARows cols (rows_of t (d_data w)))
-                       | None => is_error a
-                       end
-           | None => is_error a
-           end
-         | _ => match a with ARows _ _ | AHist _ _ => want_commit r v t a | _ => true end   (* refusing is fine; rows must be the right ones *)
-         end
-
-    if revdb_denotes r v then want_commit r v t a
-    else match (norm_base r (fst v), snd v) with
-         | (BBranch b, []) =>                         (* dirty branch: `db/branch` is the branch's working set *)
-           match branch_working r b with
-           | Some w => match assoc t (d_schema w) with
-                       | Some cols => ans_eqb a (ARows cols (rows_of t (d_data w)))
-                       | None => is_error a
-                       end
-           | None => is_error a
-           end
-         | _ => match a with ARows _ _ | AHist _ _ => want_commit r v t a | _ => true end   (* refusing is fine; rows must be the right ones *)
-         end
-
-    if revdb_denotes r v then want_commit r v t a
-    else match (norm_base r (fst v), snd v) with
-         | (BBranch b, []) =>                         (* dirty branch: `db/branch` is the branch's working set *)
-           match branch_working r b with
-           | Some w => match assoc t (d_schema w) with
-                       | Some cols => ans_eqb a (ARows cols (rows_of t (d_data w)))
-                       | None => is_error a
-                       end
-           | None => is_error a
-           end
-         | _ => match a with ARows _ _ | AHist _ _ => want_commit r v t a | _ => true end   (* refusing is fine; rows must be the right ones *)
-         end
-D    if revdb_denotes r v then want_commit r v t a
-    else match (norm_base r (fst v), snd v) with
-         | (BBranch b, []) =>                         (* dirty branch: `db/branch` is the branch's working set *)
-           match branch_working r b with
-           | Some w => match assoc t (d_schema w) with
-                       | Some cols => ans_eqb a (ARows cols (rows_of t (d_data w)))
-                       | None => is_error a
-                       end
-           | None => is_error a
-           end
-         | _ => match a with ARows _ _ | AHist _ _ => want_commit r v t a | _ => true end   (* refusing is fine; rows must be the right ones *)
-         end
-e    if revdb_denotes r v then want_commit r v t a
-    else match (norm_base r (fst v), snd v) with
-         | (BBranch b, []) =>                         (* dirty branch: `db/branch` is the branch's working set *)
-           match branch_working r b with
-           | Some w => match assoc t (d_schema w) with
-                       | Some cols => ans_eqb a (ARows cols (rows_of t (d_data w)))
-                       | None => is_error a
-                       end
-           | None => is_error a
-           end
-         | _ => match a with ARows _ _ | AHist _ _ => want_commit r v t a | _ => true end   (* refusing is fine; rows must be the right ones *)
-         end
-f    if revdb_denotes r v then want_commit r v t a
-    else match (norm_base r (fst v), snd v) with
-         | (BBranch b, []) =>                         (* dirty branch: `db/branch` is the branch's working set *)
-           match branch_working r b with
-           | Some w => match assoc t (d_schema w) with
-                       | Some cols => ans_eqb a (ARows cols (rows_of t (d_data w)))
-                       | None => is_error a
-                       end
-           | None => is_error a
-           end
-         | _ => match a with ARows _ _ | AHist _ _ => want_commit r v t a | _ => true end   (* refusing is fine; rows must be the right ones *)
-         end
-i    if revdb_denotes r v then want_commit r v t a
-    else match (norm_base r (fst v), snd v) with
-         | (BBranch b, []) =>                         (* dirty branch: `db/branch` is the branch's working set *)
-           match branch_working r b with
-           | Some w => match assoc t (d_schema w) with
-                       | Some cols => ans_eqb a (ARows cols (rows_of t (d_data w)))
-                       | None => is_error a
-                       end
-           | None => is_error a
-           end
-         | _ => match a with ARows _ _ | AHist _ _ => want_commit r v t a | _ => true end   (* refusing is fine; rows must be the right ones *)
-         end
-n    if revdb_denotes r v then want_commit r v t a
-    else match (norm_base r (fst v), snd v) with
-         | (BBranch b, []) =>                         (* dirty branch: `db/branch` is the branch's working set *)
-           match branch_working r b with
-           | Some w => match assoc t (d_schema w) with
-                       | Some cols => ans_eqb a (ARows cols (rows_of t (d_data w)))
-                       | None => is_error a
-                       end
-           | None => is_error a
-           end
-         | _ => match a with ARows _ _ | AHist _ _ => want_commit r v t a | _ => true end   (* refusing is fine; rows must be the right ones *)
-         end
-i    if revdb_denotes r v then want_commit r v t a
-    else match (norm_base r (fst v), snd v) with
-         | (BBranch b, []) =>                         (* dirty branch: `db/branch` is the branch's working set *)
-           match branch_working r b with
-           | Some w => match assoc t (d_schema w) with
-                       | Some cols => ans_eqb a (ARows cols (rows_of t (d_data w)))
-                       | None => is_error a
-                       end
-           | None => is_error a
-           end
-         | _ => match a with ARows _ _ | AHist _ _ => want_commit r v t a | _ => true end   (* refusing is fine; rows must be the right ones *)
-         end
-t    if revdb_denotes r v then want_commit r v t a
-    else match (norm_base r (fst v), snd v) with
-         | (BBranch b, []) =>                         (* dirty branch: `db/branch` is the branch's working set *)
-           match branch_working r b with
-           | Some w => match assoc t (d_schema w) with
-                       | Some cols => ans_eqb a (ARows cols (rows_of t (d_data w)))
-                       | None => is_error a
-                       end
-           | None => is_error a
-           end
-         | _ => match a with ARows _ _ | AHist _ _ => want_commit r v t a | _ => true end   (* refusing is fine; rows must be the right ones *)
-         end
-i    if revdb_denotes r v then want_commit r v t a
-    else match (norm_base r (fst v), snd v) with
-         | (BBranch b, []) =>                         (* dirty branch: `db/branch` is the branch's working set *)
-           match branch_working r b with
-           | Some w => match assoc t (d_schema w) with
-                       | Some cols => ans_eqb a (ARows cols (rows_of t (d_data w)))
-                       | None => is_error a
-                       end
-           | None => is_error a
-           end
-         | _ => match a with ARows _ _ | AHist _ _ => want_commit r v t a | _ => true end   (* refusing is fine; rows must be the right ones *)
-         end
-o    if revdb_denotes r v then want_commit r v t a
-    else match (norm_base r (fst v), snd v) with
-         | (BBranch b, []) =>                         (* dirty branch: `db/branch` is the branch's working set *)
-           match branch_working r b with
-           | Some w => match assoc t (d_schema w) with
-                       | Some cols => ans_eqb a (ARows cols (rows_of t (d_data w)))
-                       | None => is_error a
-                       end
-           | None => is_error a
-           end
-         | _ => match a with ARows _ _ | AHist _ _ => want_commit r v t a | _ => true end   (* refusing is fine; rows must be the right ones *)
-         end
-n    if revdb_denotes r v then want_commit r v t a
-    else match (norm_base r (fst v), snd v) with
-         | (BBranch b, []) =>                         (* dirty branch: `db/branch` is the branch's working set *)
-           match branch_working r b with
-           | Some w => match assoc t (d_schema w) with
-                       | Some cols => ans_eqb a (ARows cols (rows_of t (d_data w)))
-                       | None => is_error a
-                       end
-           | None => is_error a
-           end
-         | _ => match a with ARows _ _ | AHist _ _ => want_commit r v t a | _ => true end   (* refusing is fine; rows must be the right ones *)
-         end
-     if revdb_denotes r v then want_commit r v t a
-    else match (norm_base r (fst v), snd v) with
-         | (BBranch b, []) =>                         (* dirty branch: `db/branch` is the branch's working set *)
-           match branch_working r b with
-           | Some w => match assoc t (d_schema w) with
-                       | Some cols => ans_eqb a (ARows cols (rows_of t (d_data w)))
-                       | None => is_error a
-                       end
-           | None => is_error a
-           end
-         | _ => match a with ARows _ _ | AHist _ _ => want_commit r v t a | _ => true end   (* refusing is fine; rows must be the right ones *)
-         end
-m    if revdb_denotes r v then want_commit r v t a
-    else match (norm_base r (fst v), snd v) with
-         | (BBranch b, []) =>                         (* dirty branch: `db/branch` is the branch's working set *)
-           match branch_working r b with
-           | Some w => match assoc t (d_schema w) with
-                       | Some cols => ans_eqb a (ARows cols (rows_of t (d_data w)))
-                       | None => is_error a
-                       end
-           | None => is_error a
-           end
-         | _ => match a with ARows _ _ | AHist _ _ => want_commit r v t a | _ => true end   (* refusing is fine; rows must be the right ones *)
-         end
-o    if revdb_denotes r v then want_commit r v t a
-    else match (norm_base r (fst v), snd v) with
-         | (BBranch b, []) =>                         (* dirty branch: `db/branch` is the branch's working set *)
-           match branch_working r b with
-           | Some w => match assoc t (d_schema w) with
-                       | Some cols => ans_eqb a (ARows cols (rows_of t (d_data w)))
-                       | None => is_error a
-                       end
-           | None => is_error a
-           end
-         | _ => match a with ARows _ _ | AHist _ _ => want_commit r v t a | _ => true end   (* refusing is fine; rows must be the right ones *)
-         end
-d    if revdb_denotes r v then want_commit r v t a
-    else match (norm_base r (fst v), snd v) with
-         | (BBranch b, []) =>                         (* dirty branch: `db/branch` is the branch's working set *)
-           match branch_working r b with
-           | Some w => match assoc t (d_schema w) with
-                       | Some cols => ans_eqb a (ARows cols (rows_of t (d_data w)))
-                       | None => is_error a
-                       end
-           | None => is_error a
-           end
-         | _ => match a with ARows _ _ | AHist _ _ => want_commit r v t a | _ => true end   (* refusing is fine; rows must be the right ones *)
-         end
-e    if revdb_denotes r v then want_commit r v t a
-    else match (norm_base r (fst v), snd v) with
-         | (BBranch b, []) =>                         (* dirty branch: `db/branch` is the branch's working set *)
-           match branch_working r b with
-           | Some w => match assoc t (d_schema w) with
-                       | Some cols => ans_eqb a (ARows cols (rows_of t (d_data w)))
-                       | None => is_error a
-                       end
-           | None => is_error a
-           end
-         | _ => match a with ARows _ _ | AHist _ _ => want_commit r v t a | _ => true end   (* refusing is fine; rows must be the right ones *)
-         end
-l    if revdb_denotes r v then want_commit r v t a
-    else match (norm_base r (fst v), snd v) with
-         | (BBranch b, []) =>                         (* dirty branch: `db/branch` is the branch's working set *)
-           match branch_working r b with
-           | Some w => match assoc t (d_schema w) with
-                       | Some cols => ans_eqb a (ARows cols (rows_of t (d_data w)))
-                       | None => is_error a
-                       end
-           | None => is_error a
-           end
-         | _ => match a with ARows _ _ | AHist _ _ => want_commit r v t a | _ => true end   (* refusing is fine; rows must be the right ones *)
-         end
-_    if revdb_denotes r v then want_commit r v t a
-    else match (norm_base r (fst v), snd v) with
-         | (BBranch b, []) =>                         (* dirty branch: `db/branch` is the branch's working set *)
-           match branch_working r b with
-           | Some w => match assoc t (d_schema w) with
-                       | Some cols => ans_eqb a (ARows cols (rows_of t (d_data w)))
-                       | None => is_error a
-                       end
-           | None => is_error a
-           end
-         | _ => match a with ARows _ _ | AHist _ _ => want_commit r v t a | _ => true end   (* refusing is fine; rows must be the right ones *)
-         end
-o    if revdb_denotes r v then want_commit r v t a
-    else match (norm_base r (fst v), snd v) with
-         | (BBranch b, []) =>                         (* dirty branch: `db/branch` is the branch's working set *)
-           match branch_working r b with
-           | Some w => match assoc t (d_schema w) with
-                       | Some cols => ans_eqb a (ARows cols (rows_of t (d_data w)))
-                       | None => is_error a
-                       end
-           | None => is_error a
-           end
-         | _ => match a with ARows _ _ | AHist _ _ => want_commit r v t a | _ => true end   (* refusing is fine; rows must be the right ones *)
-         end
-b    if revdb_denotes r v then want_commit r v t a
-    else match (norm_base r (fst v), snd v) with
-         | (BBranch b, []) =>                         (* dirty branch: `db/branch` is the branch's working set *)
-           match branch_working r b with
-           | Some w => match assoc t (d_schema w) with
-                       | Some cols => ans_eqb a (ARows cols (rows_of t (d_data w)))
-                       | None => is_error a
-                       end
-           | None => is_error a
-           end
-         | _ => match a with ARows _ _ | AHist _ _ => want_commit r v t a | _ => true end   (* refusing is fine; rows must be the right ones *)
-         end
-s    if revdb_denotes r v then want_commit r v t a
-    else match (norm_base r (fst v), snd v) with
-         | (BBranch b, []) =>                         (* dirty branch: `db/branch` is the branch's working set *)
-           match branch_working r b with
-           | Some w => match assoc t (d_schema w) with
-                       | Some cols => ans_eqb a (ARows cols (rows_of t (d_data w)))
-                       | None => is_error a
-                       end
-           | None => is_error a
-           end
-         | _ => match a with ARows _ _ | AHist _ _ => want_commit r v t a | _ => true end   (* refusing is fine; rows must be the right ones *)
-         end
-     if revdb_denotes r v then want_commit r v t a
-    else match (norm_base r (fst v), snd v) with
-         | (BBranch b, []) =>                         (* dirty branch: `db/branch` is the branch's working set *)
-           match branch_working r b with
-           | Some w => match assoc t (d_schema w) with
-                       | Some cols => ans_eqb a (ARows cols (rows_of t (d_data w)))
-                       | None => is_error a
-                       end
-           | None => is_error a
-           end
-         | _ => match a with ARows _ _ | AHist _ _ => want_commit r v t a | _ => true end   (* refusing is fine; rows must be the right ones *)
-         end
-(    if revdb_denotes r v then want_commit r v t a
-    else match (norm_base r (fst v), snd v) with
-         | (BBranch b, []) =>                         (* dirty branch: `db/branch` is the branch's working set *)
-           match branch_working r b with
-           | Some w => match assoc t (d_schema w) with
-                       | Some cols => ans_eqb a (ARows cols (rows_of t (d_data w)))
-                       | None => is_error a
-                       end
-           | None => is_error a
-           end
-         | _ => match a with ARows _ _ | AHist _ _ => want_commit r v t a | _ => true end   (* refusing is fine; rows must be the right ones *)
-         end
-i    if revdb_denotes r v then want_commit r v t a
-    else match (norm_base r (fst v), snd v) with
-         | (BBranch b, []) =>                         (* dirty branch: `db/branch` is the branch's working set *)
-           match branch_working r b with
-           | Some w => match assoc t (d_schema w) with
-                       | Some cols => ans_eqb a (ARows cols (rows_of t (d_data w)))
-                       | None => is_error a
-                       end
-           | None => is_error a
-           end
-         | _ => match a with ARows _ _ | AHist _ _ => want_commit r v t a | _ => true end   (* refusing is fine; rows must be the right ones *)
-         end
-     if revdb_denotes r v then want_commit r v t a
-    else match (norm_base r (fst v), snd v) with
-         | (BBranch b, []) =>                         (* dirty branch: `db/branch` is the branch's working set *)
-           match branch_working r b with
-           | Some w => match assoc t (d_schema w) with
-                       | Some cols => ans_eqb a (ARows cols (rows_of t (d_data w)))
-                       | None => is_error a
-                       end
-           | None => is_error a
-           end
-         | _ => match a with ARows _ _ | AHist _ _ => want_commit r v t a | _ => true end   (* refusing is fine; rows must be the right ones *)
-         end
-:    if revdb_denotes r v then want_commit r v t a
-    else match (norm_base r (fst v), snd v) with
-         | (BBranch b, []) =>                         (* dirty branch: `db/branch` is the branch's working set *)
-           match branch_working r b with
-           | Some w => match assoc t (d_schema w) with
-                       | Some cols => ans_eqb a (ARows cols (rows_of t (d_data w)))
-                       | None => is_error a
-                       end
-           | None => is_error a
-           end
-         | _ => match a with ARows _ _ | AHist _ _ => want_commit r v t a | _ => true end   (* refusing is fine; rows must be the right ones *)
-         end
-     if revdb_denotes r v then want_commit r v t a
-    else match (norm_base r (fst v), snd v) with
-         | (BBranch b, []) =>                         (* dirty branch: `db/branch` is the branch's working set *)
-           match branch_working r b with
-           | Some w => match assoc t (d_schema w) with
-                       | Some cols => ans_eqb a (ARows cols (rows_of t (d_data w)))
-                       | None => is_error a
-                       end
-           | None => is_error a
-           end
-         | _ => match a with ARows _ _ | AHist _ _ => want_commit r v t a | _ => true end   (* refusing is fine; rows must be the right ones *)
-         end
-i    if revdb_denotes r v then want_commit r v t a
-    else match (norm_base r (fst v), snd v) with
-         | (BBranch b, []) =>                         (* dirty branch: `db/branch` is the branch's working set *)
-           match branch_working r b with
-           | Some w => match assoc t (d_schema w) with
-                       | Some cols => ans_eqb a (ARows cols (rows_of t (d_data w)))
-                       | None => is_error a
-                       end
-           | None => is_error a
-           end
-         | _ => match a with ARows _ _ | AHist _ _ => want_commit r v t a | _ => true end   (* refusing is fine; rows must be the right ones *)
-         end
-n    if revdb_denotes r v then want_commit r v t a
-    else match (norm_base r (fst v), snd v) with
-         | (BBranch b, []) =>                         (* dirty branch: `db/branch` is the branch's working set *)
-           match branch_working r b with
-           | Some w => match assoc t (d_schema w) with
-                       | Some cols => ans_eqb a (ARows cols (rows_of t (d_data w)))
-                       | None => is_error a
-                       end
-           | None => is_error a
-           end
-         | _ => match a with ARows _ _ | AHist _ _ => want_commit r v t a | _ => true end   (* refusing is fine; rows must be the right ones *)
-         end
-p    if revdb_denotes r v then want_commit r v t a
-    else match (norm_base r (fst v), snd v) with
-         | (BBranch b, []) =>                         (* dirty branch: `db/branch` is the branch's working set *)
-           match branch_working r b with
-           | Some w => match assoc t (d_schema w) with
-                       | Some cols => ans_eqb a (ARows cols (rows_of t (d_data w)))
-                       | None => is_error a
-                       end
-           | None => is_error a
-           end
-         | _ => match a with ARows _ _ | AHist _ _ => want_commit r v t a | _ => true end   (* refusing is fine; rows must be the right ones *)
-         end
-u    if revdb_denotes r v then want_commit r v t a
-    else match (norm_base r (fst v), snd v) with
-         | (BBranch b, []) =>                         (* dirty branch: `db/branch` is the branch's working set *)
-           match branch_working r b with
-           | Some w => match assoc t (d_schema w) with
-                       | Some cols => ans_eqb a (ARows cols (rows_of t (d_data w)))
-                       | None => is_error a
-                       end
-           | None => is_error a
-           end
-         | _ => match a with ARows _ _ | AHist _ _ => want_commit r v t a | _ => true end   (* refusing is fine; rows must be the right ones *)
-         end
-t    if revdb_denotes r v then want_commit r v t a
-    else match (norm_base r (fst v), snd v) with
-         | (BBranch b, []) =>                         (* dirty branch: `db/branch` is the branch's working set *)
-           match branch_working r b with
-           | Some w => match assoc t (d_schema w) with
-                       | Some cols => ans_eqb a (ARows cols (rows_of t (d_data w)))
-                       | None => is_error a
-                       end
-           | None => is_error a
-           end
-         | _ => match a with ARows _ _ | AHist _ _ => want_commit r v t a | _ => true end   (* refusing is fine; rows must be the right ones *)
-         end
-)    if revdb_denotes r v then want_commit r v t a
-    else match (norm_base r (fst v), snd v) with
-         | (BBranch b, []) =>                         (* dirty branch: `db/branch` is the branch's working set *)
-           match branch_working r b with
-           | Some w => match assoc t (d_schema w) with
-                       | Some cols => ans_eqb a (ARows cols (rows_of t (d_data w)))
-                       | None => is_error a
-                       end
-           | None => is_error a
-           end
-         | _ => match a with ARows _ _ | AHist _ _ => want_commit r v t a | _ => true end   (* refusing is fine; rows must be the right ones *)
-         end
-     if revdb_denotes r v then want_commit r v t a
-    else match (norm_base r (fst v), snd v) with
-         | (BBranch b, []) =>                         (* dirty branch: `db/branch` is the branch's working set *)
-           match branch_working r b with
-           | Some w => match assoc t (d_schema w) with
-                       | Some cols => ans_eqb a (ARows cols (rows_of t (d_data w)))
-                       | None => is_error a
-                       end
-           | None => is_error a
-           end
-         | _ => match a with ARows _ _ | AHist _ _ => want_commit r v t a | _ => true end   (* refusing is fine; rows must be the right ones *)
-         end
-:    if revdb_denotes r v then want_commit r v t a
-    else match (norm_base r (fst v), snd v) with
-         | (BBranch b, []) =>                         (* dirty branch: `db/branch` is the branch's working set *)
-           match branch_working r b with
-           | Some w => match assoc t (d_schema w) with
-                       | Some cols => ans_eqb a (ARows cols (rows_of t (d_data w)))
-                       | None => is_error a
-                       end
-           | None => is_error a
-           end
-         | _ => match a with ARows _ _ | AHist _ _ => want_commit r v t a | _ => true end   (* refusing is fine; rows must be the right ones *)
-         end
-     if revdb_denotes r v then want_commit r v t a
-    else match (norm_base r (fst v), snd v) with
-         | (BBranch b, []) =>                         (* dirty branch: `db/branch` is the branch's working set *)
-           match branch_working r b with
-           | Some w => match assoc t (d_schema w) with
-                       | Some cols => ans_eqb a (ARows cols (rows_of t (d_data w)))
-                       | None => is_error a
-                       end
-           | None => is_error a
-           end
-         | _ => match a with ARows _ _ | AHist _ _ => want_commit r v t a | _ => true end   (* refusing is fine; rows must be the right ones *)
-         end
-o    if revdb_denotes r v then want_commit r v t a
-    else match (norm_base r (fst v), snd v) with
-         | (BBranch b, []) =>                         (* dirty branch: `db/branch` is the branch's working set *)
-           match branch_working r b with
-           | Some w => match assoc t (d_schema w) with
-                       | Some cols => ans_eqb a (ARows cols (rows_of t (d_data w)))
-                       | None => is_error a
-                       end
-           | None => is_error a
-           end
-         | _ => match a with ARows _ _ | AHist _ _ => want_commit r v t a | _ => true end   (* refusing is fine; rows must be the right ones *)
-         end
-b    if revdb_denotes r v then want_commit r v t a
-    else match (norm_base r (fst v), snd v) with
-         | (BBranch b, []) =>                         (* dirty branch: `db/branch` is the branch's working set *)
-           match branch_working r b with
-           | Some w => match assoc t (d_schema w) with
-                       | Some cols => ans_eqb a (ARows cols (rows_of t (d_data w)))
-                       | None => is_error a
-                       end
-           | None => is_error a
-           end
-         | _ => match a with ARows _ _ | AHist _ _ => want_commit r v t a | _ => true end   (* refusing is fine; rows must be the right ones *)
-         end
-s    if revdb_denotes r v then want_commit r v t a
-    else match (norm_base r (fst v), snd v) with
-         | (BBranch b, []) =>                         (* dirty branch: `db/branch` is the branch's working set *)
-           match branch_working r b with
-           | Some w => match assoc t (d_schema w) with
-                       | Some cols => ans_eqb a (ARows cols (rows_of t (d_data w)))
-                       | None => is_error a
-                       end
-           | None => is_error a
-           end
-         | _ => match a with ARows _ _ | AHist _ _ => want_commit r v t a | _ => true end   (* refusing is fine; rows must be the right ones *)
-         end
-     if revdb_denotes r v then want_commit r v t a
-    else match (norm_base r (fst v), snd v) with
-         | (BBranch b, []) =>                         (* dirty branch: `db/branch` is the branch's working set *)
-           match branch_working r b with
-           | Some w => match assoc t (d_schema w) with
-                       | Some cols => ans_eqb a (ARows cols (rows_of t (d_data w)))
-                       | None => is_error a
-                       end
-           | None => is_error a
-           end
-         | _ => match a with ARows _ _ | AHist _ _ => want_commit r v t a | _ => true end   (* refusing is fine; rows must be the right ones *)
-         end
-:    if revdb_denotes r v then want_commit r v t a
-    else match (norm_base r (fst v), snd v) with
-         | (BBranch b, []) =>                         (* dirty branch: `db/branch` is the branch's working set *)
-           match branch_working r b with
-           | Some w => match assoc t (d_schema w) with
-                       | Some cols => ans_eqb a (ARows cols (rows_of t (d_data w)))
-                       | None => is_error a
-                       end
-           | None => is_error a
-           end
-         | _ => match a with ARows _ _ | AHist _ _ => want_commit r v t a | _ => true end   (* refusing is fine; rows must be the right ones *)
-         end
-=    if revdb_denotes r v then want_commit r v t a
-    else match (norm_base r (fst v), snd v) with
-         | (BBranch b, []) =>                         (* dirty branch: `db/branch` is the branch's working set *)
-           match branch_working r b with
-           | Some w => match assoc t (d_schema w) with
-                       | Some cols => ans_eqb a (ARows cols (rows_of t (d_data w)))
-                       | None => is_error a
-                       end
-           | None => is_error a
-           end
-         | _ => match a with ARows _ _ | AHist _ _ => want_commit r v t a | _ => true end   (* refusing is fine; rows must be the right ones *)
-         end
-     if revdb_denotes r v then want_commit r v t a
-    else match (norm_base r (fst v), snd v) with
-         | (BBranch b, []) =>                         (* dirty branch: `db/branch` is the branch's working set *)
-           match branch_working r b with
-           | Some w => match assoc t (d_schema w) with
-                       | Some cols => ans_eqb a (ARows cols (rows_of t (d_data w)))
-                       | None => is_error a
-                       end
-           | None => is_error a
-           end
-         | _ => match a with ARows _ _ | AHist _ _ => want_commit r v t a | _ => true end   (* refusing is fine; rows must be the right ones *)
-         end
-m    if revdb_denotes r v then want_commit r v t a
-    else match (norm_base r (fst v), snd v) with
-         | (BBranch b, []) =>                         (* dirty branch: `db/branch` is the branch's working set *)
-           match branch_working r b with
-           | Some w => match assoc t (d_schema w) with
-                       | Some cols => ans_eqb a (ARows cols (rows_of t (d_data w)))
-                       | None => is_error a
-                       end
-           | None => is_error a
-           end
-         | _ => match a with ARows _ _ | AHist _ _ => want_commit r v t a | _ => true end   (* refusing is fine; rows must be the right ones *)
-         end
-a    if revdb_denotes r v then want_commit r v t a
-    else match (norm_base r (fst v), snd v) with
-         | (BBranch b, []) =>                         (* dirty branch: `db/branch` is the branch's working set *)
-           match branch_working r b with
-           | Some w => match assoc t (d_schema w) with
-                       | Some cols => ans_eqb a (ARows cols (rows_of t (d_data w)))
-                       | None => is_error a
-                       end
-           | None => is_error a
-           end
-         | _ => match a with ARows _ _ | AHist _ _ => want_commit r v t a | _ => true end   (* refusing is fine; rows must be the right ones *)
-         end
-p    if revdb_denotes r v then want_commit r v t a
-    else match (norm_base r (fst v), snd v) with
-         | (BBranch b, []) =>                         (* dirty branch: `db/branch` is the branch's working set *)
-           match branch_working r b with
-           | Some w => match assoc t (d_schema w) with
-                       | Some cols => ans_eqb a (ARows cols (rows_of t (d_data w)))
-                       | None => is_error a
-                       end
-           | None => is_error a
-           end
-         | _ => match a with ARows _ _ | AHist _ _ => want_commit r v t a | _ => true end   (* refusing is fine; rows must be the right ones *)
-         end
-     if revdb_denotes r v then want_commit r v t a
-    else match (norm_base r (fst v), snd v) with
-         | (BBranch b, []) =>                         (* dirty branch: `db/branch` is the branch's working set *)
-           match branch_working r b with
-           | Some w => match assoc t (d_schema w) with
-                       | Some cols => ans_eqb a (ARows cols (rows_of t (d_data w)))
-                       | None => is_error a
-                       end
-           | None => is_error a
-           end
-         | _ => match a with ARows _ _ | AHist _ _ => want_commit r v t a | _ => true end   (* refusing is fine; rows must be the right ones *)
-         end
-(    if revdb_denotes r v then want_commit r v t a
-    else match (norm_base r (fst v), snd v) with
-         | (BBranch b, []) =>                         (* dirty branch: `db/branch` is the branch's working set *)
-           match branch_working r b with
-           | Some w => match assoc t (d_schema w) with
-                       | Some cols => ans_eqb a (ARows cols (rows_of t (d_data w)))
-                       | None => is_error a
-                       end
-           | None => is_error a
-           end
-         | _ => match a with ARows _ _ | AHist _ _ => want_commit r v t a | _ => true end   (* refusing is fine; rows must be the right ones *)
-         end
-a    if revdb_denotes r v then want_commit r v t a
-    else match (norm_base r (fst v), snd v) with
-         | (BBranch b, []) =>                         (* dirty branch: `db/branch` is the branch's working set *)
-           match branch_working r b with
-           | Some w => match assoc t (d_schema w) with
-                       | Some cols => ans_eqb a (ARows cols (rows_of t (d_data w)))
-                       | None => is_error a
-                       end
-           | None => is_error a
-           end
-         | _ => match a with ARows _ _ | AHist _ _ => want_commit r v t a | _ => true end   (* refusing is fine; rows must be the right ones *)
-         end
-n    if revdb_denotes r v then want_commit r v t a
-    else match (norm_base r (fst v), snd v) with
-         | (BBranch b, []) =>                         (* dirty branch: `db/branch` is the branch's working set *)
-           match branch_working r b with
-           | Some w => match assoc t (d_schema w) with
-                       | Some cols => ans_eqb a (ARows cols (rows_of t (d_data w)))
-                       | None => is_error a
-                       end
-           | None => is_error a
-           end
-         | _ => match a with ARows _ _ | AHist _ _ => want_commit r v t a | _ => true end   (* refusing is fine; rows must be the right ones *)
-         end
-s    if revdb_denotes r v then want_commit r v t a
-    else match (norm_base r (fst v), snd v) with
-         | (BBranch b, []) =>                         (* dirty branch: `db/branch` is the branch's working set *)
-           match branch_working r b with
-           | Some w => match assoc t (d_schema w) with
-                       | Some cols => ans_eqb a (ARows cols (rows_of t (d_data w)))
-                       | None => is_error a
-                       end
-           | None => is_error a
-           end
-         | _ => match a with ARows _ _ | AHist _ _ => want_commit r v t a | _ => true end   (* refusing is fine; rows must be the right ones *)
-         end
-w    if revdb_denotes r v then want_commit r v t a
-    else match (norm_base r (fst v), snd v) with
-         | (BBranch b, []) =>                         (* dirty branch: `db/branch` is the branch's working set *)
-           match branch_working r b with
-           | Some w => match assoc t (d_schema w) with
-                       | Some cols => ans_eqb a (ARows cols (rows_of t (d_data w)))
-                       | None => is_error a
-                       end
-           | None => is_error a
-           end
-         | _ => match a with ARows _ _ | AHist _ _ => want_commit r v t a | _ => true end   (* refusing is fine; rows must be the right ones *)
-         end
-e    if revdb_denotes r v then want_commit r v t a
-    else match (norm_base r (fst v), snd v) with
-         | (BBranch b, []) =>                         (* dirty branch: `db/branch` is the branch's working set *)
-           match branch_working r b with
-           | Some w => match assoc t (d_schema w) with
-                       | Some cols => ans_eqb a (ARows cols (rows_of t (d_data w)))
-                       | None => is_error a
-                       end
-           | None => is_error a
-           end
-         | _ => match a with ARows _ _ | AHist _ _ => want_commit r v t a | _ => true end   (* refusing is fine; rows must be the right ones *)
-         end
-r    if revdb_denotes r v then want_commit r v t a
-    else match (norm_base r (fst v), snd v) with
-         | (BBranch b, []) =>                         (* dirty branch: `db/branch` is the branch's working set *)
-           match branch_working r b with
-           | Some w => match assoc t (d_schema w) with
-                       | Some cols => ans_eqb a (ARows cols (rows_of t (d_data w)))
-                       | None => is_error a
-                       end
-           | None => is_error a
-           end
-         | _ => match a with ARows _ _ | AHist _ _ => want_commit r v t a | _ => true end   (* refusing is fine; rows must be the right ones *)
-         end
-     if revdb_denotes r v then want_commit r v t a
-    else match (norm_base r (fst v), snd v) with
-         | (BBranch b, []) =>                         (* dirty branch: `db/branch` is the branch's working set *)
-           match branch_working r b with
-           | Some w => match assoc t (d_schema w) with
-                       | Some cols => ans_eqb a (ARows cols (rows_of t (d_data w)))
-                       | None => is_error a
-                       end
-           | None => is_error a
-           end
-         | _ => match a with ARows _ _ | AHist _ _ => want_commit r v t a | _ => true end   (* refusing is fine; rows must be the right ones *)
-         end
-(    if revdb_denotes r v then want_commit r v t a
-    else match (norm_base r (fst v), snd v) with
-         | (BBranch b, []) =>                         (* dirty branch: `db/branch` is the branch's working set *)
-           match branch_working r b with
-           | Some w => match assoc t (d_schema w) with
-                       | Some cols => ans_eqb a (ARows cols (rows_of t (d_data w)))
-                       | None => is_error a
-                       end
-           | None => is_error a
-           end
-         | _ => match a with ARows _ _ | AHist _ _ => want_commit r v t a | _ => true end   (* refusing is fine; rows must be the right ones *)
-         end
-f    if revdb_denotes r v then want_commit r v t a
-    else match (norm_base r (fst v), snd v) with
-         | (BBranch b, []) =>                         (* dirty branch: `db/branch` is the branch's working set *)
-           match branch_working r b with
-           | Some w => match assoc t (d_schema w) with
-                       | Some cols => ans_eqb a (ARows cols (rows_of t (d_data w)))
-                       | None => is_error a
-                       end
-           | None => is_error a
-           end
-         | _ => match a with ARows _ _ | AHist _ _ => want_commit r v t a | _ => true end   (* refusing is fine; rows must be the right ones *)
-         end
-s    if revdb_denotes r v then want_commit r v t a
-    else match (norm_base r (fst v), snd v) with
-         | (BBranch b, []) =>                         (* dirty branch: `db/branch` is the branch's working set *)
-           match branch_working r b with
-           | Some w => match assoc t (d_schema w) with
-                       | Some cols => ans_eqb a (ARows cols (rows_of t (d_data w)))
-                       | None => is_error a
-                       end
-           | None => is_error a
-           end
-         | _ => match a with ARows _ _ | AHist _ _ => want_commit r v t a | _ => true end   (* refusing is fine; rows must be the right ones *)
-         end
-t    if revdb_denotes r v then want_commit r v t a
-    else match (norm_base r (fst v), snd v) with
-         | (BBranch b, []) =>                         (* dirty branch: `db/branch` is the branch's working set *)
-           match branch_working r b with
-           | Some w => match assoc t (d_schema w) with
-                       | Some cols => ans_eqb a (ARows cols (rows_of t (d_data w)))
-                       | None => is_error a
-                       end
-           | None => is_error a
-           end
-         | _ => match a with ARows _ _ | AHist _ _ => want_commit r v t a | _ => true end   (* refusing is fine; rows must be the right ones *)
-         end
-     if revdb_denotes r v then want_commit r v t a
-    else match (norm_base r (fst v), snd v) with
-         | (BBranch b, []) =>                         (* dirty branch: `db/branch` is the branch's working set *)
-           match branch_working r b with
-           | Some w => match assoc t (d_schema w) with
-                       | Some cols => ans_eqb a (ARows cols (rows_of t (d_data w)))
-                       | None => is_error a
-                       end
-           | None => is_error a
-           end
-         | _ => match a with ARows _ _ | AHist _ _ => want_commit r v t a | _ => true end   (* refusing is fine; rows must be the right ones *)
-         end
-i    if revdb_denotes r v then want_commit r v t a
-    else match (norm_base r (fst v), snd v) with
-         | (BBranch b, []) =>                         (* dirty branch: `db/branch` is the branch's working set *)
-           match branch_working r b with
-           | Some w => match assoc t (d_schema w) with
-                       | Some cols => ans_eqb a (ARows cols (rows_of t (d_data w)))
-                       | None => is_error a
-                       end
-           | None => is_error a
-           end
-         | _ => match a with ARows _ _ | AHist _ _ => want_commit r v t a | _ => true end   (* refusing is fine; rows must be the right ones *)
-         end
-)    if revdb_denotes r v then want_commit r v t a
-    else match (norm_base r (fst v), snd v) with
-         | (BBranch b, []) =>                         (* dirty branch: `db/branch` is the branch's working set *)
-           match branch_working r b with
-           | Some w => match assoc t (d_schema w) with
-                       | Some cols => ans_eqb a (ARows cols (rows_of t (d_data w)))
-                       | None => is_error a
-                       end
-           | None => is_error a
-           end
-         | _ => match a with ARows _ _ | AHist _ _ => want_commit r v t a | _ => true end   (* refusing is fine; rows must be the right ones *)
-         end
-)    if revdb_denotes r v then want_commit r v t a
-    else match (norm_base r (fst v), snd v) with
-         | (BBranch b, []) =>                         (* dirty branch: `db/branch` is the branch's working set *)
-           match branch_working r b with
-           | Some w => match assoc t (d_schema w) with
-                       | Some cols => ans_eqb a (ARows cols (rows_of t (d_data w)))
-                       | None => is_error a
-                       end
-           | None => is_error a
-           end
-         | _ => match a with ARows _ _ | AHist _ _ => want_commit r v t a | _ => true end   (* refusing is fine; rows must be the right ones *)
-         end
-     if revdb_denotes r v then want_commit r v t a
-    else match (norm_base r (fst v), snd v) with
-         | (BBranch b, []) =>                         (* dirty branch: `db/branch` is the branch's working set *)
-           match branch_working r b with
-           | Some w => match assoc t (d_schema w) with
-                       | Some cols => ans_eqb a (ARows cols (rows_of t (d_data w)))
-                       | None => is_error a
-                       end
-           | None => is_error a
-           end
-         | _ => match a with ARows _ _ | AHist _ _ => want_commit r v t a | _ => true end   (* refusing is fine; rows must be the right ones *)
-         end
-(    if revdb_denotes r v then want_commit r v t a
-    else match (norm_base r (fst v), snd v) with
-         | (BBranch b, []) =>                         (* dirty branch: `db/branch` is the branch's working set *)
-           match branch_working r b with
-           | Some w => match assoc t (d_schema w) with
-                       | Some cols => ans_eqb a (ARows cols (rows_of t (d_data w)))
-                       | None => is_error a
-                       end
-           | None => is_error a
-           end
-         | _ => match a with ARows _ _ | AHist _ _ => want_commit r v t a | _ => true end   (* refusing is fine; rows must be the right ones *)
-         end
-s    if revdb_denotes r v then want_commit r v t a
-    else match (norm_base r (fst v), snd v) with
-         | (BBranch b, []) =>                         (* dirty branch: `db/branch` is the branch's working set *)
-           match branch_working r b with
-           | Some w => match assoc t (d_schema w) with
-                       | Some cols => ans_eqb a (ARows cols (rows_of t (d_data w)))
-                       | None => is_error a
-                       end
-           | None => is_error a
-           end
-         | _ => match a with ARows _ _ | AHist _ _ => want_commit r v t a | _ => true end   (* refusing is fine; rows must be the right ones *)
-         end
-n    if revdb_denotes r v then want_commit r v t a
-    else match (norm_base r (fst v), snd v) with
-         | (BBranch b, []) =>                         (* dirty branch: `db/branch` is the branch's working set *)
-           match branch_working r b with
-           | Some w => match assoc t (d_schema w) with
-                       | Some cols => ans_eqb a (ARows cols (rows_of t (d_data w)))
-                       | None => is_error a
-                       end
-           | None => is_error a
-           end
-         | _ => match a with ARows _ _ | AHist _ _ => want_commit r v t a | _ => true end   (* refusing is fine; rows must be the right ones *)
-         end
-d    if revdb_denotes r v then want_commit r v t a
-    else match (norm_base r (fst v), snd v) with
-         | (BBranch b, []) =>                         (* dirty branch: `db/branch` is the branch's working set *)
-           match branch_working r b with
-           | Some w => match assoc t (d_schema w) with
-                       | Some cols => ans_eqb a (ARows cols (rows_of t (d_data w)))
-                       | None => is_error a
-                       end
-           | None => is_error a
-           end
-         | _ => match a with ARows _ _ | AHist _ _ => want_commit r v t a | _ => true end   (* refusing is fine; rows must be the right ones *)
-         end
-     if revdb_denotes r v then want_commit r v t a
-    else match (norm_base r (fst v), snd v) with
-         | (BBranch b, []) =>                         (* dirty branch: `db/branch` is the branch's working set *)
-           match branch_working r b with
-           | Some w => match assoc t (d_schema w) with
-                       | Some cols => ans_eqb a (ARows cols (rows_of t (d_data w)))
-                       | None => is_error a
-                       end
-           | None => is_error a
-           end
-         | _ => match a with ARows _ _ | AHist _ _ => want_commit r v t a | _ => true end   (* refusing is fine; rows must be the right ones *)
-         end
-i    if revdb_denotes r v then want_commit r v t a
-    else match (norm_base r (fst v), snd v) with
-         | (BBranch b, []) =>                         (* dirty branch: `db/branch` is the branch's working set *)
-           match branch_working r b with
-           | Some w => match assoc t (d_schema w) with
-                       | Some cols => ans_eqb a (ARows cols (rows_of t (d_data w)))
-                       | None => is_error a
-                       end
-           | None => is_error a
-           end
-         | _ => match a with ARows _ _ | AHist _ _ => want_commit r v t a | _ => true end   (* refusing is fine; rows must be the right ones *)
-         end
-)    if revdb_denotes r v then want_commit r v t a
-    else match (norm_base r (fst v), snd v) with
-         | (BBranch b, []) =>                         (* dirty branch: `db/branch` is the branch's working set *)
-           match branch_working r b with
-           | Some w => match assoc t (d_schema w) with
-                       | Some cols => ans_eqb a (ARows cols (rows_of t (d_data w)))
-                       | None => is_error a
-                       end
-           | None => is_error a
-           end
-         | _ => match a with ARows _ _ | AHist _ _ => want_commit r v t a | _ => true end   (* refusing is fine; rows must be the right ones *)
-         end
-.    if revdb_denotes r v then want_commit r v t a
-    else match (norm_base r (fst v), snd v) with
-         | (BBranch b, []) =>                         (* dirty branch: `db/branch` is the branch's working set *)
-           match branch_working r b with
-           | Some w => match assoc t (d_schema w) with
-                       | Some cols => ans_eqb a (ARows cols (rows_of t (d_data w)))
-                       | None => is_error a
-                       end
-           | None => is_error a
-           end
-         | _ => match a with ARows _ _ | AHist _ _ => want_commit r v t a | _ => true end   (* refusing is fine; rows must be the right ones *)
-         end
-
-    if revdb_denotes r v then want_commit r v t a
-    else match (norm_base r (fst v), snd v) with
-         | (BBranch b, []) =>                         (* dirty branch: `db/branch` is the branch's working set *)
-           match branch_working r b with
-           | Some w => match assoc t (d_schema w) with
-                       | Some cols => ans_eqb a (ARows cols (rows_of t (d_data w)))
-                       | None => is_error a
-                       end
-           | None => is_error a
-           end
-         | _ => match a with ARows _ _ | AHist _ _ => want_commit r v t a | _ => true end   (* refusing is fine; rows must be the right ones *)
-         end
-
-    if revdb_denotes r v then want_commit r v t a
-    else match (norm_base r (fst v), snd v) with
-         | (BBranch b, []) =>                         (* dirty branch: `db/branch` is the branch's working set *)
-           match branch_working r b with
-           | Some w => match assoc t (d_schema w) with
-                       | Some cols => ans_eqb a (ARows cols (rows_of t (d_data w)))
-                       | None => is_error a
-                       end
-           | None => is_error a
-           end
-         | _ => match a with ARows _ _ | AHist _ _ => want_commit r v t a | _ => true end   (* refusing is fine; rows must be the right ones *)
-         end
-F    if revdb_denotes r v then want_commit r v t a
-    else match (norm_base r (fst v), snd v) with
-         | (BBranch b, []) =>                         (* dirty branch: `db/branch` is the branch's working set *)
-           match branch_working r b with
-           | Some w => match assoc t (d_schema w) with
-                       | Some cols => ans_eqb a (ARows cols (rows_of t (d_data w)))
-                       | None => is_error a
-                       end
-           | None => is_error a
-           end
-         | _ => match a with ARows _ _ | AHist _ _ => want_commit r v t a | _ => true end   (* refusing is fine; rows must be the right ones *)
-         end
-i    if revdb_denotes r v then want_commit r v t a
-    else match (norm_base r (fst v), snd v) with
-         | (BBranch b, []) =>                         (* dirty branch: `db/branch` is the branch's working set *)
-           match branch_working r b with
-           | Some w => match assoc t (d_schema w) with
-                       | Some cols => ans_eqb a (ARows cols (rows_of t (d_data w)))
-                       | None => is_error a
-                       end
-           | None => is_error a
-           end
-         | _ => match a with ARows _ _ | AHist _ _ => want_commit r v t a | _ => true end   (* refusing is fine; rows must be the right ones *)
-         end
-x    if revdb_denotes r v then want_commit r v t a
-    else match (norm_base r (fst v), snd v) with
-         | (BBranch b, []) =>                         (* dirty branch: `db/branch` is the branch's working set *)
-           match branch_working r b with
-           | Some w => match assoc t (d_schema w) with
-                       | Some cols => ans_eqb a (ARows cols (rows_of t (d_data w)))
-                       | None => is_error a
-                       end
-           | None => is_error a
-           end
-         | _ => match a with ARows _ _ | AHist _ _ => want_commit r v t a | _ => true end   (* refusing is fine; rows must be the right ones *)
-         end
-p    if revdb_denotes r v then want_commit r v t a
-    else match (norm_base r (fst v), snd v) with
-         | (BBranch b, []) =>                         (* dirty branch: `db/branch` is the branch's working set *)
-           match branch_working r b with
-           | Some w => match assoc t (d_schema w) with
-                       | Some cols => ans_eqb a (ARows cols (rows_of t (d_data w)))
-                       | None => is_error a
-                       end
-           | None => is_error a
-           end
-         | _ => match a with ARows _ _ | AHist _ _ => want_commit r v t a | _ => true end   (* refusing is fine; rows must be the right ones *)
-         end
-o    if revdb_denotes r v then want_commit r v t a
-    else match (norm_base r (fst v), snd v) with
-         | (BBranch b, []) =>                         (* dirty branch: `db/branch` is the branch's working set *)
-           match branch_working r b with
-           | Some w => match assoc t (d_schema w) with
-                       | Some cols => ans_eqb a (ARows cols (rows_of t (d_data w)))
-                       | None => is_error a
-                       end
-           | None => is_error a
-           end
-         | _ => match a with ARows _ _ | AHist _ _ => want_commit r v t a | _ => true end   (* refusing is fine; rows must be the right ones *)
-         end
-i    if revdb_denotes r v then want_commit r v t a
-    else match (norm_base r (fst v), snd v) with
-         | (BBranch b, []) =>                         (* dirty branch: `db/branch` is the branch's working set *)
-           match branch_working r b with
-           | Some w => match assoc t (d_schema w) with
-                       | Some cols => ans_eqb a (ARows cols (rows_of t (d_data w)))
-                       | None => is_error a
-                       end
-           | None => is_error a
-           end
-         | _ => match a with ARows _ _ | AHist _ _ => want_commit r v t a | _ => true end   (* refusing is fine; rows must be the right ones *)
-         end
-n    if revdb_denotes r v then want_commit r v t a
-    else match (norm_base r (fst v), snd v) with
-         | (BBranch b, []) =>                         (* dirty branch: `db/branch` is the branch's working set *)
-           match branch_working r b with
-           | Some w => match assoc t (d_schema w) with
-                       | Some cols => ans_eqb a (ARows cols (rows_of t (d_data w)))
-                       | None => is_error a
-                       end
-           | None => is_error a
-           end
-         | _ => match a with ARows _ _ | AHist _ _ => want_commit r v t a | _ => true end   (* refusing is fine; rows must be the right ones *)
-         end
-t    if revdb_denotes r v then want_commit r v t a
-    else match (norm_base r (fst v), snd v) with
-         | (BBranch b, []) =>                         (* dirty branch: `db/branch` is the branch's working set *)
-           match branch_working r b with
-           | Some w => match assoc t (d_schema w) with
-                       | Some cols => ans_eqb a (ARows cols (rows_of t (d_data w)))
-                       | None => is_error a
-                       end
-           | None => is_error a
-           end
-         | _ => match a with ARows _ _ | AHist _ _ => want_commit r v t a | _ => true end   (* refusing is fine; rows must be the right ones *)
-         end
-     if revdb_denotes r v then want_commit r v t a
-    else match (norm_base r (fst v), snd v) with
-         | (BBranch b, []) =>                         (* dirty branch: `db/branch` is the branch's working set *)
-           match branch_working r b with
-           | Some w => match assoc t (d_schema w) with
-                       | Some cols => ans_eqb a (ARows cols (rows_of t (d_data w)))
-                       | None => is_error a
-                       end
-           | None => is_error a
-           end
-         | _ => match a with ARows _ _ | AHist _ _ => want_commit r v t a | _ => true end   (* refusing is fine; rows must be the right ones *)
-         end
-o    if revdb_denotes r v then want_commit r v t a
-    else match (norm_base r (fst v), snd v) with
-         | (BBranch b, []) =>                         (* dirty branch: `db/branch` is the branch's working set *)
-           match branch_working r b with
-           | Some w => match assoc t (d_schema w) with
-                       | Some cols => ans_eqb a (ARows cols (rows_of t (d_data w)))
-                       | None => is_error a
-                       end
-           | None => is_error a
-           end
-         | _ => match a with ARows _ _ | AHist _ _ => want_commit r v t a | _ => true end   (* refusing is fine; rows must be the right ones *)
-         end
-b    if revdb_denotes r v then want_commit r v t a
-    else match (norm_base r (fst v), snd v) with
-         | (BBranch b, []) =>                         (* dirty branch: `db/branch` is the branch's working set *)
-           match branch_working r b with
-           | Some w => match assoc t (d_schema w) with
-                       | Some cols => ans_eqb a (ARows cols (rows_of t (d_data w)))
-                       | None => is_error a
-                       end
-           | None => is_error a
-           end
-         | _ => match a with ARows _ _ | AHist _ _ => want_commit r v t a | _ => true end   (* refusing is fine; rows must be the right ones *)
-         end
-s    if revdb_denotes r v then want_commit r v t a
-    else match (norm_base r (fst v), snd v) with
-         | (BBranch b, []) =>                         (* dirty branch: `db/branch` is the branch's working set *)
-           match branch_working r b with
-           | Some w => match assoc t (d_schema w) with
-                       | Some cols => ans_eqb a (ARows cols (rows_of t (d_data w)))
-                       | None => is_error a
-                       end
-           | None => is_error a
-           end
-         | _ => match a with ARows _ _ | AHist _ _ => want_commit r v t a | _ => true end   (* refusing is fine; rows must be the right ones *)
-         end
-_    if revdb_denotes r v then want_commit r v t a
-    else match (norm_base r (fst v), snd v) with
-         | (BBranch b, []) =>                         (* dirty branch: `db/branch` is the branch's working set *)
-           match branch_working r b with
-           | Some w => match assoc t (d_schema w) with
-                       | Some cols => ans_eqb a (ARows cols (rows_of t (d_data w)))
-                       | None => is_error a
-                       end
-           | None => is_error a
-           end
-         | _ => match a with ARows _ _ | AHist _ _ => want_commit r v t a | _ => true end   (* refusing is fine; rows must be the right ones *)
-         end
-e    if revdb_denotes r v then want_commit r v t a
-    else match (norm_base r (fst v), snd v) with
-         | (BBranch b, []) =>                         (* dirty branch: `db/branch` is the branch's working set *)
-           match branch_working r b with
-           | Some w => match assoc t (d_schema w) with
-                       | Some cols => ans_eqb a (ARows cols (rows_of t (d_data w)))
-                       | None => is_error a
-                       end
-           | None => is_error a
-           end
-         | _ => match a with ARows _ _ | AHist _ _ => want_commit r v t a | _ => true end   (* refusing is fine; rows must be the right ones *)
-         end
-q    if revdb_denotes r v then want_commit r v t a
-    else match (norm_base r (fst v), snd v) with
-         | (BBranch b, []) =>                         (* dirty branch: `db/branch` is the branch's working set *)
-           match branch_working r b with
-           | Some w => match assoc t (d_schema w) with
-                       | Some cols => ans_eqb a (ARows cols (rows_of t (d_data w)))
-                       | None => is_error a
-                       end
-           | None => is_error a
-           end
-         | _ => match a with ARows _ _ | AHist _ _ => want_commit r v t a | _ => true end   (* refusing is fine; rows must be the right ones *)
-         end
-b    if revdb_denotes r v then want_commit r v t a
-    else match (norm_base r (fst v), snd v) with
-         | (BBranch b, []) =>                         (* dirty branch: `db/branch` is the branch's working set *)
-           match branch_working r b with
-           | Some w => match assoc t (d_schema w) with
-                       | Some cols => ans_eqb a (ARows cols (rows_of t (d_data w)))
-                       | None => is_error a
-                       end
-           | None => is_error a
-           end
-         | _ => match a with ARows _ _ | AHist _ _ => want_commit r v t a | _ => true end   (* refusing is fine; rows must be the right ones *)
-         end
-     if revdb_denotes r v then want_commit r v t a
-    else match (norm_base r (fst v), snd v) with
-         | (BBranch b, []) =>                         (* dirty branch: `db/branch` is the branch's working set *)
-           match branch_working r b with
-           | Some w => match assoc t (d_schema w) with
-                       | Some cols => ans_eqb a (ARows cols (rows_of t (d_data w)))
-                       | None => is_error a
-                       end
-           | None => is_error a
-           end
-         | _ => match a with ARows _ _ | AHist _ _ => want_commit r v t a | _ => true end   (* refusing is fine; rows must be the right ones *)
-         end
-(    if revdb_denotes r v then want_commit r v t a
-    else match (norm_base r (fst v), snd v) with
-         | (BBranch b, []) =>                         (* dirty branch: `db/branch` is the branch's working set *)
-           match branch_working r b with
-           | Some w => match assoc t (d_schema w) with
-                       | Some cols => ans_eqb a (ARows cols (rows_of t (d_data w)))
-                       | None => is_error a
-                       end
-           | None => is_error a
-           end
-         | _ => match a with ARows _ _ | AHist _ _ => want_commit r v t a | _ => true end   (* refusing is fine; rows must be the right ones *)
-         end
-a    if revdb_denotes r v then want_commit r v t a
-    else match (norm_base r (fst v), snd v) with
-         | (BBranch b, []) =>                         (* dirty branch: `db/branch` is the branch's working set *)
-           match branch_working r b with
-           | Some w => match assoc t (d_schema w) with
-                       | Some cols => ans_eqb a (ARows cols (rows_of t (d_data w)))
-                       | None => is_error a
-                       end
-           | None => is_error a
-           end
-         | _ => match a with ARows _ _ | AHist _ _ => want_commit r v t a | _ => true end   (* refusing is fine; rows must be the right ones *)
-         end
-     if revdb_denotes r v then want_commit r v t a
-    else match (norm_base r (fst v), snd v) with
-         | (BBranch b, []) =>                         (* dirty branch: `db/branch` is the branch's working set *)
-           match branch_working r b with
-           | Some w => match assoc t (d_schema w) with
-                       | Some cols => ans_eqb a (ARows cols (rows_of t (d_data w)))
-                       | None => is_error a
-                       end
-           | None => is_error a
-           end
-         | _ => match a with ARows _ _ | AHist _ _ => want_commit r v t a | _ => true end   (* refusing is fine; rows must be the right ones *)
-         end
-b    if revdb_denotes r v then want_commit r v t a
-    else match (norm_base r (fst v), snd v) with
-         | (BBranch b, []) =>                         (* dirty branch: `db/branch` is the branch's working set *)
-           match branch_working r b with
-           | Some w => match assoc t (d_schema w) with
-                       | Some cols => ans_eqb a (ARows cols (rows_of t (d_data w)))
-                       | None => is_error a
-                       end
-           | None => is_error a
-           end
-         | _ => match a with ARows _ _ | AHist _ _ => want_commit r v t a | _ => true end   (* refusing is fine; rows must be the right ones *)
-         end
-     if revdb_denotes r v then want_commit r v t a
-    else match (norm_base r (fst v), snd v) with
-         | (BBranch b, []) =>                         (* dirty branch: `db/branch` is the branch's working set *)
-           match branch_working r b with
-           | Some w => match assoc t (d_schema w) with
-                       | Some cols => ans_eqb a (ARows cols (rows_of t (d_data w)))
-                       | None => is_error a
-                       end
-           | None => is_error a
-           end
-         | _ => match a with ARows _ _ | AHist _ _ => want_commit r v t a | _ => true end   (* refusing is fine; rows must be the right ones *)
-         end
-:    if revdb_denotes r v then want_commit r v t a
-    else match (norm_base r (fst v), snd v) with
-         | (BBranch b, []) =>                         (* dirty branch: `db/branch` is the branch's working set *)
-           match branch_working r b with
-           | Some w => match assoc t (d_schema w) with
-                       | Some cols => ans_eqb a (ARows cols (rows_of t (d_data w)))
-                       | None => is_error a
-                       end
-           | None => is_error a
-           end
-         | _ => match a with ARows _ _ | AHist _ _ => want_commit r v t a | _ => true end   (* refusing is fine; rows must be the right ones *)
-         end
-     if revdb_denotes r v then want_commit r v t a
-    else match (norm_base r (fst v), snd v) with
-         | (BBranch b, []) =>                         (* dirty branch: `db/branch` is the branch's working set *)
-           match branch_working r b with
-           | Some w => match assoc t (d_schema w) with
-                       | Some cols => ans_eqb a (ARows cols (rows_of t (d_data w)))
-                       | None => is_error a
-                       end
-           | None => is_error a
-           end
-         | _ => match a with ARows _ _ | AHist _ _ => want_commit r v t a | _ => true end   (* refusing is fine; rows must be the right ones *)
-         end
-o    if revdb_denotes r v then want_commit r v t a
-    else match (norm_base r (fst v), snd v) with
-         | (BBranch b, []) =>                         (* dirty branch: `db/branch` is the branch's working set *)
-           match branch_working r b with
-           | Some w => match assoc t (d_schema w) with
-                       | Some cols => ans_eqb a (ARows cols (rows_of t (d_data w)))
-                       | None => is_error a
-                       end
-           | None => is_error a
-           end
-         | _ => match a with ARows _ _ | AHist _ _ => want_commit r v t a | _ => true end   (* refusing is fine; rows must be the right ones *)
-         end
-b    if revdb_denotes r v then want_commit r v t a
-    else match (norm_base r (fst v), snd v) with
-         | (BBranch b, []) =>                         (* dirty branch: `db/branch` is the branch's working set *)
-           match branch_working r b with
-           | Some w => match assoc t (d_schema w) with
-                       | Some cols => ans_eqb a (ARows cols (rows_of t (d_data w)))
-                       | None => is_error a
-                       end
-           | None => is_error a
-           end
-         | _ => match a with ARows _ _ | AHist _ _ => want_commit r v t a | _ => true end   (* refusing is fine; rows must be the right ones *)
-         end
-s    if revdb_denotes r v then want_commit r v t a
-    else match (norm_base r (fst v), snd v) with
-         | (BBranch b, []) =>                         (* dirty branch: `db/branch` is the branch's working set *)
-           match branch_working r b with
-           | Some w => match assoc t (d_schema w) with
-                       | Some cols => ans_eqb a (ARows cols (rows_of t (d_data w)))
-                       | None => is_error a
-                       end
-           | None => is_error a
-           end
-         | _ => match a with ARows _ _ | AHist _ _ => want_commit r v t a | _ => true end   (* refusing is fine; rows must be the right ones *)
-         end
-)    if revdb_denotes r v then want_commit r v t a
-    else match (norm_base r (fst v), snd v) with
-         | (BBranch b, []) =>                         (* dirty branch: `db/branch` is the branch's working set *)
-           match branch_working r b with
-           | Some w => match assoc t (d_schema w) with
-                       | Some cols => ans_eqb a (ARows cols (rows_of t (d_data w)))
-                       | None => is_error a
-                       end
-           | None => is_error a
-           end
-         | _ => match a with ARows _ _ | AHist _ _ => want_commit r v t a | _ => true end   (* refusing is fine; rows must be the right ones *)
-         end
-     if revdb_denotes r v then want_commit r v t a
-    else match (norm_base r (fst v), snd v) with
-         | (BBranch b, []) =>                         (* dirty branch: `db/branch` is the branch's working set *)
-           match branch_working r b with
-           | Some w => match assoc t (d_schema w) with
-                       | Some cols => ans_eqb a (ARows cols (rows_of t (d_data w)))
-                       | None => is_error a
-                       end
-           | None => is_error a
-           end
-         | _ => match a with ARows _ _ | AHist _ _ => want_commit r v t a | _ => true end   (* refusing is fine; rows must be the right ones *)
-         end
-:    if revdb_denotes r v then want_commit r v t a
-    else match (norm_base r (fst v), snd v) with
-         | (BBranch b, []) =>                         (* dirty branch: `db/branch` is the branch's working set *)
-           match branch_working r b with
-           | Some w => match assoc t (d_schema w) with
-                       | Some cols => ans_eqb a (ARows cols (rows_of t (d_data w)))
-                       | None => is_error a
-                       end
-           | None => is_error a
-           end
-         | _ => match a with ARows _ _ | AHist _ _ => want_commit r v t a | _ => true end   (* refusing is fine; rows must be the right ones *)
-         end
-     if revdb_denotes r v then want_commit r v t a
-    else match (norm_base r (fst v), snd v) with
-         | (BBranch b, []) =>                         (* dirty branch: `db/branch` is the branch's working set *)
-           match branch_working r b with
-           | Some w => match assoc t (d_schema w) with
-                       | Some cols => ans_eqb a (ARows cols (rows_of t (d_data w)))
-                       | None => is_error a
-                       end
-           | None => is_error a
-           end
-         | _ => match a with ARows _ _ | AHist _ _ => want_commit r v t a | _ => true end   (* refusing is fine; rows must be the right ones *)
-         end
-b    if revdb_denotes r v then want_commit r v t a
-    else match (norm_base r (fst v), snd v) with
-         | (BBranch b, []) =>                         (* dirty branch: `db/branch` is the branch's working set *)
-           match branch_working r b with
-           | Some w => match assoc t (d_schema w) with
-                       | Some cols => ans_eqb a (ARows cols (rows_of t (d_data w)))
-                       | None => is_error a
-                       end
-           | None => is_error a
-           end
-         | _ => match a with ARows _ _ | AHist _ _ => want_commit r v t a | _ => true end   (* refusing is fine; rows must be the right ones *)
-         end
-o    if revdb_denotes r v then want_commit r v t a
-    else match (norm_base r (fst v), snd v) with
-         | (BBranch b, []) =>                         (* dirty branch: `db/branch` is the branch's working set *)
-           match branch_working r b with
-           | Some w => match assoc t (d_schema w) with
-                       | Some cols => ans_eqb a (ARows cols (rows_of t (d_data w)))
-                       | None => is_error a
-                       end
-           | None => is_error a
-           end
-         | _ => match a with ARows _ _ | AHist _ _ => want_commit r v t a | _ => true end   (* refusing is fine; rows must be the right ones *)
-         end
-o    if revdb_denotes r v then want_commit r v t a
-    else match (norm_base r (fst v), snd v) with
-         | (BBranch b, []) =>                         (* dirty branch: `db/branch` is the branch's working set *)
-           match branch_working r b with
-           | Some w => match assoc t (d_schema w) with
-                       | Some cols => ans_eqb a (ARows cols (rows_of t (d_data w)))
-                       | None => is_error a
-                       end
-           | None => is_error a
-           end
-         | _ => match a with ARows _ _ | AHist _ _ => want_commit r v t a | _ => true end   (* refusing is fine; rows must be the right ones *)
-         end
-l    if revdb_denotes r v then want_commit r v t a
-    else match (norm_base r (fst v), snd v) with
-         | (BBranch b, []) =>                         (* dirty branch: `db/branch` is the branch's working set *)
-           match branch_working r b with
-           | Some w => match assoc t (d_schema w) with
-                       | Some cols => ans_eqb a (ARows cols (rows_of t (d_data w)))
-                       | None => is_error a
-                       end
-           | None => is_error a
-           end
-         | _ => match a with ARows _ _ | AHist _ _ => want_commit r v t a | _ => true end   (* refusing is fine; rows must be the right ones *)
-         end
-     if revdb_denotes r v then want_commit r v t a
-    else match (norm_base r (fst v), snd v) with
-         | (BBranch b, []) =>                         (* dirty branch: `db/branch` is the branch's working set *)
-           match branch_working r b with
-           | Some w => match assoc t (d_schema w) with
-                       | Some cols => ans_eqb a (ARows cols (rows_of t (d_data w)))
-                       | None => is_error a
-                       end
-           | None => is_error a
-           end
-         | _ => match a with ARows _ _ | AHist _ _ => want_commit r v t a | _ => true end   (* refusing is fine; rows must be the right ones *)
-         end
-:    if revdb_denotes r v then want_commit r v t a
-    else match (norm_base r (fst v), snd v) with
-         | (BBranch b, []) =>                         (* dirty branch: `db/branch` is the branch's working set *)
-           match branch_working r b with
-           | Some w => match assoc t (d_schema w) with
-                       | Some cols => ans_eqb a (ARows cols (rows_of t (d_data w)))
-                       | None => is_error a
-                       end
-           | None => is_error a
-           end
-         | _ => match a with ARows _ _ | AHist _ _ => want_commit r v t a | _ => true end   (* refusing is fine; rows must be the right ones *)
-         end
-=    if revdb_denotes r v then want_commit r v t a
-    else match (norm_base r (fst v), snd v) with
-         | (BBranch b, []) =>                         (* dirty branch: `db/branch` is the branch's working set *)
-           match branch_working r b with
-           | Some w => match assoc t (d_schema w) with
-                       | Some cols => ans_eqb a (ARows cols (rows_of t (d_data w)))
-                       | None => is_error a
-                       end
-           | None => is_error a
-           end
-         | _ => match a with ARows _ _ | AHist _ _ => want_commit r v t a | _ => true end   (* refusing is fine; rows must be the right ones *)
-         end
-
-    if revdb_denotes r v then want_commit r v t a
-    else match (norm_base r (fst v), snd v) with
-         | (BBranch b, []) =>                         (* dirty branch: `db/branch` is the branch's working set *)
-           match branch_working r b with
-           | Some w => match assoc t (d_schema w) with
-                       | Some cols => ans_eqb a (ARows cols (rows_of t (d_data w)))
-                       | None => is_error a
-                       end
-           | None => is_error a
-           end
-         | _ => match a with ARows _ _ | AHist _ _ => want_commit r v t a | _ => true end   (* refusing is fine; rows must be the right ones *)
-         end
-     if revdb_denotes r v then want_commit r v t a
-    else match (norm_base r (fst v), snd v) with
-         | (BBranch b, []) =>                         (* dirty branch: `db/branch` is the branch's working set *)
-           match branch_working r b with
-           | Some w => match assoc t (d_schema w) with
-                       | Some cols => ans_eqb a (ARows cols (rows_of t (d_data w)))
-                       | None => is_error a
-                       end
-           | None => is_error a
-           end
-         | _ => match a with ARows _ _ | AHist _ _ => want_commit r v t a | _ => true end   (* refusing is fine; rows must be the right ones *)
-         end
-     if revdb_denotes r v then want_commit r v t a
-    else match (norm_base r (fst v), snd v) with
-         | (BBranch b, []) =>                         (* dirty branch: `db/branch` is the branch's working set *)
-           match branch_working r b with
-           | Some w => match assoc t (d_schema w) with
-                       | Some cols => ans_eqb a (ARows cols (rows_of t (d_data w)))
-                       | None => is_error a
-                       end
-           | None => is_error a
-           end
-         | _ => match a with ARows _ _ | AHist _ _ => want_commit r v t a | _ => true end   (* refusing is fine; rows must be the right ones *)
-         end
-m    if revdb_denotes r v then want_commit r v t a
-    else match (norm_base r (fst v), snd v) with
-         | (BBranch b, []) =>                         (* dirty branch: `db/branch` is the branch's working set *)
-           match branch_working r b with
-           | Some w => match assoc t (d_schema w) with
-                       | Some cols => ans_eqb a (ARows cols (rows_of t (d_data w)))
-                       | None => is_error a
-                       end
-           | None => is_error a
-           end
-         | _ => match a with ARows _ _ | AHist _ _ => want_commit r v t a | _ => true end   (* refusing is fine; rows must be the right ones *)
-         end
-a    if revdb_denotes r v then want_commit r v t a
-    else match (norm_base r (fst v), snd v) with
-         | (BBranch b, []) =>                         (* dirty branch: `db/branch` is the branch's working set *)
-           match branch_working r b with
-           | Some w => match assoc t (d_schema w) with
-                       | Some cols => ans_eqb a (ARows cols (rows_of t (d_data w)))
-                       | None => is_error a
-                       end
-           | None => is_error a
-           end
-         | _ => match a with ARows _ _ | AHist _ _ => want_commit r v t a | _ => true end   (* refusing is fine; rows must be the right ones *)
-         end
-t    if revdb_denotes r v then want_commit r v t a
-    else match (norm_base r (fst v), snd v) with
-         | (BBranch b, []) =>                         (* dirty branch: `db/branch` is the branch's working set *)
-           match branch_working r b with
-           | Some w => match assoc t (d_schema w) with
-                       | Some cols => ans_eqb a (ARows cols (rows_of t (d_data w)))
-                       | None => is_error a
-                       end
-           | None => is_error a
-           end
-         | _ => match a with ARows _ _ | AHist _ _ => want_commit r v t a | _ => true end   (* refusing is fine; rows must be the right ones *)
-         end
-c    if revdb_denotes r v then want_commit r v t a
-    else match (norm_base r (fst v), snd v) with
-         | (BBranch b, []) =>                         (* dirty branch: `db/branch` is the branch's working set *)
-           match branch_working r b with
-           | Some w => match assoc t (d_schema w) with
-                       | Some cols => ans_eqb a (ARows cols (rows_of t (d_data w)))
-                       | None => is_error a
-                       end
-           | None => is_error a
-           end
-         | _ => match a with ARows _ _ | AHist _ _ => want_commit r v t a | _ => true end   (* refusing is fine; rows must be the right ones *)
-         end
-h    if revdb_denotes r v then want_commit r v t a
-    else match (norm_base r (fst v), snd v) with
-         | (BBranch b, []) =>                         (* dirty branch: `db/branch` is the branch's working set *)
-           match branch_working r b with
-           | Some w => match assoc t (d_schema w) with
-                       | Some cols => ans_eqb a (ARows cols (rows_of t (d_data w)))
-                       | None => is_error a
-                       end
-           | None => is_error a
-           end
-         | _ => match a with ARows _ _ | AHist _ _ => want_commit r v t a | _ => true end   (* refusing is fine; rows must be the right ones *)
-         end
-     if revdb_denotes r v then want_commit r v t a
-    else match (norm_base r (fst v), snd v) with
-         | (BBranch b, []) =>                         (* dirty branch: `db/branch` is the branch's working set *)
-           match branch_working r b with
-           | Some w => match assoc t (d_schema w) with
-                       | Some cols => ans_eqb a (ARows cols (rows_of t (d_data w)))
-                       | None => is_error a
-                       end
-           | None => is_error a
-           end
-         | _ => match a with ARows _ _ | AHist _ _ => want_commit r v t a | _ => true end   (* refusing is fine; rows must be the right ones *)
-         end
-a    if revdb_denotes r v then want_commit r v t a
-    else match (norm_base r (fst v), snd v) with
-         | (BBranch b, []) =>                         (* dirty branch: `db/branch` is the branch's working set *)
-           match branch_working r b with
-           | Some w => match assoc t (d_schema w) with
-                       | Some cols => ans_eqb a (ARows cols (rows_of t (d_data w)))
-                       | None => is_error a
-                       end
-           | None => is_error a
-           end
-         | _ => match a with ARows _ _ | AHist _ _ => want_commit r v t a | _ => true end   (* refusing is fine; rows must be the right ones *)
-         end
-,    if revdb_denotes r v then want_commit r v t a
-    else match (norm_base r (fst v), snd v) with
-         | (BBranch b, []) =>                         (* dirty branch: `db/branch` is the branch's working set *)
-           match branch_working r b with
-           | Some w => match assoc t (d_schema w) with
-                       | Some cols => ans_eqb a (ARows cols (rows_of t (d_data w)))
-                       | None => is_error a
-                       end
-           | None => is_error a
-           end
-         | _ => match a with ARows _ _ | AHist _ _ => want_commit r v t a | _ => true end   (* refusing is fine; rows must be the right ones *)
-         end
-     if revdb_denotes r v then want_commit r v t a
-    else match (norm_base r (fst v), snd v) with
-         | (BBranch b, []) =>                         (* dirty branch: `db/branch` is the branch's working set *)
-           match branch_working r b with
-           | Some w => match assoc t (d_schema w) with
-                       | Some cols => ans_eqb a (ARows cols (rows_of t (d_data w)))
-                       | None => is_error a
-                       end
-           | None => is_error a
-           end
-         | _ => match a with ARows _ _ | AHist _ _ => want_commit r v t a | _ => true end   (* refusing is fine; rows must be the right ones *)
-         end
-b    if revdb_denotes r v then want_commit r v t a
-    else match (norm_base r (fst v), snd v) with
-         | (BBranch b, []) =>                         (* dirty branch: `db/branch` is the branch's working set *)
-           match branch_working r b with
-           | Some w => match assoc t (d_schema w) with
-                       | Some cols => ans_eqb a (ARows cols (rows_of t (d_data w)))
-                       | None => is_error a
-                       end
-           | None => is_error a
-           end
-         | _ => match a with ARows _ _ | AHist _ _ => want_commit r v t a | _ => true end   (* refusing is fine; rows must be the right ones *)
-         end
-     if revdb_denotes r v then want_commit r v t a
-    else match (norm_base r (fst v), snd v) with
-         | (BBranch b, []) =>                         (* dirty branch: `db/branch` is the branch's working set *)
-           match branch_working r b with
-           | Some w => match assoc t (d_schema w) with
-                       | Some cols => ans_eqb a (ARows cols (rows_of t (d_data w)))
-                       | None => is_error a
-                       end
-           | None => is_error a
-           end
-         | _ => match a with ARows _ _ | AHist _ _ => want_commit r v t a | _ => true end   (* refusing is fine; rows must be the right ones *)
-         end
-w    if revdb_denotes r v then want_commit r v t a
-    else match (norm_base r (fst v), snd v) with
-         | (BBranch b, []) =>                         (* dirty branch: `db/branch` is the branch's working set *)
-           match branch_working r b with
-           | Some w => match assoc t (d_schema w) with
-                       | Some cols => ans_eqb a (ARows cols (rows_of t (d_data w)))
-                       | None => is_error a
-                       end
-           | None => is_error a
-           end
-         | _ => match a with ARows _ _ | AHist _ _ => want_commit r v t a | _ => true end   (* refusing is fine; rows must be the right ones *)
-         end
-i    if revdb_denotes r v then want_commit r v t a
-    else match (norm_base r (fst v), snd v) with
-         | (BBranch b, []) =>                         (* dirty branch: `db/branch` is the branch's working set *)
-           match branch_working r b with
-           | Some w => match assoc t (d_schema w) with
-                       | Some cols => ans_eqb a (ARows cols (rows_of t (d_data w)))
-                       | None => is_error a
-                       end
-           | None => is_error a
-           end
-         | _ => match a with ARows _ _ | AHist _ _ => want_commit r v t a | _ => true end   (* refusing is fine; rows must be the right ones *)
-         end
-t    if revdb_denotes r v then want_commit r v t a
-    else match (norm_base r (fst v), snd v) with
-         | (BBranch b, []) =>                         (* dirty branch: `db/branch` is the branch's working set *)
-           match branch_working r b with
-           | Some w => match assoc t (d_schema w) with
-                       | Some cols => ans_eqb a (ARows cols (rows_of t (d_data w)))
-                       | None => is_error a
-                       end
-           | None => is_error a
-           end
-         | _ => match a with ARows _ _ | AHist _ _ => want_commit r v t a | _ => true end   (* refusing is fine; rows must be the right ones *)
-         end
-h    if revdb_denotes r v then want_commit r v t a
-    else match (norm_base r (fst v), snd v) with
-         | (BBranch b, []) =>                         (* dirty branch: `db/branch` is the branch's working set *)
-           match branch_working r b with
-           | Some w => match assoc t (d_schema w) with
-                       | Some cols => ans_eqb a (ARows cols (rows_of t (d_data w)))
-                       | None => is_error a
-                       end
-           | None => is_error a
-           end
-         | _ => match a with ARows _ _ | AHist _ _ => want_commit r v t a | _ => true end   (* refusing is fine; rows must be the right ones *)
-         end
-
-    if revdb_denotes r v then want_commit r v t a
-    else match (norm_base r (fst v), snd v) with
-         | (BBranch b, []) =>                         (* dirty branch: `db/branch` is the branch's working set *)
-           match branch_working r b with
-           | Some w => match assoc t (d_schema w) with
-                       | Some cols => ans_eqb a (ARows cols (rows_of t (d_data w)))
-                       | None => is_error a
-                       end
-           | None => is_error a
-           end
-         | _ => match a with ARows _ _ | AHist _ _ => want_commit r v t a | _ => true end   (* refusing is fine; rows must be the right ones *)
-         end
-     if revdb_denotes r v then want_commit r v t a
-    else match (norm_base r (fst v), snd v) with
-         | (BBranch b, []) =>                         (* dirty branch: `db/branch` is the branch's working set *)
-           match branch_working r b with
-           | Some w => match assoc t (d_schema w) with
-                       | Some cols => ans_eqb a (ARows cols (rows_of t (d_data w)))
-                       | None => is_error a
-                       end
-           | None => is_error a
-           end
-         | _ => match a with ARows _ _ | AHist _ _ => want_commit r v t a | _ => true end   (* refusing is fine; rows must be the right ones *)
-         end
-     if revdb_denotes r v then want_commit r v t a
-    else match (norm_base r (fst v), snd v) with
-         | (BBranch b, []) =>                         (* dirty branch: `db/branch` is the branch's working set *)
-           match branch_working r b with
-           | Some w => match assoc t (d_schema w) with
-                       | Some cols => ans_eqb a (ARows cols (rows_of t (d_data w)))
-                       | None => is_error a
-                       end
-           | None => is_error a
-           end
-         | _ => match a with ARows _ _ | AHist _ _ => want_commit r v t a | _ => true end   (* refusing is fine; rows must be the right ones *)
-         end
-|    if revdb_denotes r v then want_commit r v t a
-    else match (norm_base r (fst v), snd v) with
-         | (BBranch b, []) =>                         (* dirty branch: `db/branch` is the branch's working set *)
-           match branch_working r b with
-           | Some w => match assoc t (d_schema w) with
-                       | Some cols => ans_eqb a (ARows cols (rows_of t (d_data w)))
-                       | None => is_error a
-                       end
-           | None => is_error a
-           end
-         | _ => match a with ARows _ _ | AHist _ _ => want_commit r v t a | _ => true end   (* refusing is fine; rows must be the right ones *)
-         end
-     if revdb_denotes r v then want_commit r v t a
-    else match (norm_base r (fst v), snd v) with
-         | (BBranch b, []) =>                         (* dirty branch: `db/branch` is the branch's working set *)
-           match branch_working r b with
-           | Some w => match assoc t (d_schema w) with
-                       | Some cols => ans_eqb a (ARows cols (rows_of t (d_data w)))
-                       | None => is_error a
-                       end
-           | None => is_error a
-           end
-         | _ => match a with ARows _ _ | AHist _ _ => want_commit r v t a | _ => true end   (* refusing is fine; rows must be the right ones *)
-         end
-[    if revdb_denotes r v then want_commit r v t a
-    else match (norm_base r (fst v), snd v) with
-         | (BBranch b, []) =>                         (* dirty branch: `db/branch` is the branch's working set *)
-           match branch_working r b with
-           | Some w => match assoc t (d_schema w) with
-                       | Some cols => ans_eqb a (ARows cols (rows_of t (d_data w)))
-                       | None => is_error a
-                       end
-           | None => is_error a
-           end
-         | _ => match a with ARows _ _ | AHist _ _ => want_commit r v t a | _ => true end   (* refusing is fine; rows must be the right ones *)
-         end
-]    if revdb_denotes r v then want_commit r v t a
-    else match (norm_base r (fst v), snd v) with
-         | (BBranch b, []) =>                         (* dirty branch: `db/branch` is the branch's working set *)
-           match branch_working r b with
-           | Some w => match assoc t (d_schema w) with
-                       | Some cols => ans_eqb a (ARows cols (rows_of t (d_data w)))
-                       | None => is_error a
-                       end
-           | None => is_error a
-           end
-         | _ => match a with ARows _ _ | AHist _ _ => want_commit r v t a | _ => true end   (* refusing is fine; rows must be the right ones *)
-         end
-,    if revdb_denotes r v then want_commit r v t a
-    else match (norm_base r (fst v), snd v) with
-         | (BBranch b, []) =>                         (* dirty branch: `db/branch` is the branch's working set *)
-           match branch_working r b with
-           | Some w => match assoc t (d_schema w) with
-                       | Some cols => ans_eqb a (ARows cols (rows_of t (d_data w)))
-                       | None => is_error a
-                       end
-           | None => is_error a
-           end
-         | _ => match a with ARows _ _ | AHist _ _ => want_commit r v t a | _ => true end   (* refusing is fine; rows must be the right ones *)
-         end
-     if revdb_denotes r v then want_commit r v t a
-    else match (norm_base r (fst v), snd v) with
-         | (BBranch b, []) =>                         (* dirty branch: `db/branch` is the branch's working set *)
-           match branch_working r b with
-           | Some w => match assoc t (d_schema w) with
-                       | Some cols => ans_eqb a (ARows cols (rows_of t (d_data w)))
-                       | None => is_error a
-                       end
-           | None => is_error a
-           end
-         | _ => match a with ARows _ _ | AHist _ _ => want_commit r v t a | _ => true end   (* refusing is fine; rows must be the right ones *)
-         end
-[    if revdb_denotes r v then want_commit r v t a
-    else match (norm_base r (fst v), snd v) with
-         | (BBranch b, []) =>                         (* dirty branch: `db/branch` is the branch's working set *)
-           match branch_working r b with
-           | Some w => match assoc t (d_schema w) with
-                       | Some cols => ans_eqb a (ARows cols (rows_of t (d_data w)))
-                       | None => is_error a
-                       end
-           | None => is_error a
-           end
-         | _ => match a with ARows _ _ | AHist _ _ => want_commit r v t a | _ => true end   (* refusing is fine; rows must be the right ones *)
-         end
-]    if revdb_denotes r v then want_commit r v t a
-    else match (norm_base r (fst v), snd v) with
-         | (BBranch b, []) =>                         (* dirty branch: `db/branch` is the branch's working set *)
-           match branch_working r b with
-           | Some w => match assoc t (d_schema w) with
-                       | Some cols => ans_eqb a (ARows cols (rows_of t (d_data w)))
-                       | None => is_error a
-                       end
-           | None => is_error a
-           end
-         | _ => match a with ARows _ _ | AHist _ _ => want_commit r v t a | _ => true end   (* refusing is fine; rows must be the right ones *)
-         end
-     if revdb_denotes r v then want_commit r v t a
-    else match (norm_base r (fst v), snd v) with
-         | (BBranch b, []) =>                         (* dirty branch: `db/branch` is the branch's working set *)
-           match branch_working r b with
-           | Some w => match assoc t (d_schema w) with
-                       | Some cols => ans_eqb a (ARows cols (rows_of t (d_data w)))
-                       | None => is_error a
-                       end
-           | None => is_error a
-           end
-         | _ => match a with ARows _ _ | AHist _ _ => want_commit r v t a | _ => true end   (* refusing is fine; rows must be the right ones *)
-         end
-=    if revdb_denotes r v then want_commit r v t a
-    else match (norm_base r (fst v), snd v) with
-         | (BBranch b, []) =>                         (* dirty branch: `db/branch` is the branch's working set *)
-           match branch_working r b with
-           | Some w => match assoc t (d_schema w) with
-                       | Some cols => ans_eqb a (ARows cols (rows_of t (d_data w)))
-                       | None => is_error a
-                       end
-           | None => is_error a
-           end
-         | _ => match a with ARows _ _ | AHist _ _ => want_commit r v t a | _ => true end   (* refusing is fine; rows must be the right ones *)
-         end
->    if revdb_denotes r v then want_commit r v t a
-    else match (norm_base r (fst v), snd v) with
-         | (BBranch b, []) =>                         (* dirty branch: `db/branch` is the branch's working set *)
-           match branch_working r b with
-           | Some w => match assoc t (d_schema w) with
-                       | Some cols => ans_eqb a (ARows cols (rows_of t (d_data w)))
-                       | None => is_error a
-                       end
-           | None => is_error a
-           end
-         | _ => match a with ARows _ _ | AHist _ _ => want_commit r v t a | _ => true end   (* refusing is fine; rows must be the right ones *)
-         end
-     if revdb_denotes r v then want_commit r v t a
-    else match (norm_base r (fst v), snd v) with
-         | (BBranch b, []) =>                         (* dirty branch: `db/branch` is the branch's working set *)
-           match branch_working r b with
-           | Some w => match assoc t (d_schema w) with
-                       | Some cols => ans_eqb a (ARows cols (rows_of t (d_data w)))
-                       | None => is_error a
-                       end
-           | None => is_error a
-           end
-         | _ => match a with ARows _ _ | AHist _ _ => want_commit r v t a | _ => true end   (* refusing is fine; rows must be the right ones *)
-         end
-t    if revdb_denotes r v then want_commit r v t a
-    else match (norm_base r (fst v), snd v) with
-         | (BBranch b, []) =>                         (* dirty branch: `db/branch` is the branch's working set *)
-           match branch_working r b with
-           | Some w => match assoc t (d_schema w) with
-                       | Some cols => ans_eqb a (ARows cols (rows_of t (d_data w)))
-                       | None => is_error a
-                       end
-           | None => is_error a
-           end
-         | _ => match a with ARows _ _ | AHist _ _ => want_commit r v t a | _ => true end   (* refusing is fine; rows must be the right ones *)
-         end
-r    if revdb_denotes r v then want_commit r v t a
-    else match (norm_base r (fst v), snd v) with
-         | (BBranch b, []) =>                         (* dirty branch: `db/branch` is the branch's working set *)
-           match branch_working r b with
-           | Some w => match assoc t (d_schema w) with
-                       | Some cols => ans_eqb a (ARows cols (rows_of t (d_data w)))
-                       | None => is_error a
-                       end
-           | None => is_error a
-           end
-         | _ => match a with ARows _ _ | AHist _ _ => want_commit r v t a | _ => true end   (* refusing is fine; rows must be the right ones *)
-         end
-u    if revdb_denotes r v then want_commit r v t a
-    else match (norm_base r (fst v), snd v) with
-         | (BBranch b, []) =>                         (* dirty branch: `db/branch` is the branch's working set *)
-           match branch_working r b with
-           | Some w => match assoc t (d_schema w) with
-                       | Some cols => ans_eqb a (ARows cols (rows_of t (d_data w)))
-                       | None => is_error a
-                       end
-           | None => is_error a
-           end
-         | _ => match a with ARows _ _ | AHist _ _ => want_commit r v t a | _ => true end   (* refusing is fine; rows must be the right ones *)
-         end
-e    if revdb_denotes r v then want_commit r v t a
-    else match (norm_base r (fst v), snd v) with
-         | (BBranch b, []) =>                         (* dirty branch: `db/branch` is the branch's working set *)
-           match branch_working r b with
-           | Some w => match assoc t (d_schema w) with
-                       | Some cols => ans_eqb a (ARows cols (rows_of t (d_data w)))
-                       | None => is_error a
-                       end
-           | None => is_error a
-           end
-         | _ => match a with ARows _ _ | AHist _ _ => want_commit r v t a | _ => true end   (* refusing is fine; rows must be the right ones *)
-         end
-
-    if revdb_denotes r v then want_commit r v t a
-    else match (norm_base r (fst v), snd v) with
-         | (BBranch b, []) =>                         (* dirty branch: `db/branch` is the branch's working set *)
-           match branch_working r b with
-           | Some w => match assoc t (d_schema w) with
-                       | Some cols => ans_eqb a (ARows cols (rows_of t (d_data w)))
-                       | None => is_error a
-                       end
-           | None => is_error a
-           end
-         | _ => match a with ARows _ _ | AHist _ _ => want_commit r v t a | _ => true end   (* refusing is fine; rows must be the right ones *)
-         end
-     if revdb_denotes r v then want_commit r v t a
-    else match (norm_base r (fst v), snd v) with
-         | (BBranch b, []) =>                         (* dirty branch: `db/branch` is the branch's working set *)
-           match branch_working r b with
-           | Some w => match assoc t (d_schema w) with
-                       | Some cols => ans_eqb a (ARows cols (rows_of t (d_data w)))
-                       | None => is_error a
-                       end
-           | None => is_error a
-           end
-         | _ => match a with ARows _ _ | AHist _ _ => want_commit r v t a | _ => true end   (* refusing is fine; rows must be the right ones *)
-         end
-     if revdb_denotes r v then want_commit r v t a
-    else match (norm_base r (fst v), snd v) with
-         | (BBranch b, []) =>                         (* dirty branch: `db/branch` is the branch's working set *)
-           match branch_working r b with
-           | Some w => match assoc t (d_schema w) with
-                       | Some cols => ans_eqb a (ARows cols (rows_of t (d_data w)))
-                       | None => is_error a
-                       end
-           | None => is_error a
-           end
-         | _ => match a with ARows _ _ | AHist _ _ => want_commit r v t a | _ => true end   (* refusing is fine; rows must be the right ones *)
-         end
-|    if revdb_denotes r v then want_commit r v t a
-    else match (norm_base r (fst v), snd v) with
-         | (BBranch b, []) =>                         (* dirty branch: `db/branch` is the branch's working set *)
-           match branch_working r b with
-           | Some w => match assoc t (d_schema w) with
-                       | Some cols => ans_eqb a (ARows cols (rows_of t (d_data w)))
-                       | None => is_error a
-                       end
-           | None => is_error a
-           end
-         | _ => match a with ARows _ _ | AHist _ _ => want_commit r v t a | _ => true end   (* refusing is fine; rows must be the right ones *)
-         end
-     if revdb_denotes r v then want_commit r v t a
-    else match (norm_base r (fst v), snd v) with
-         | (BBranch b, []) =>                         (* dirty branch: `db/branch` is the branch's working set *)
-           match branch_working r b with
-           | Some w => match assoc t (d_schema w) with
-                       | Some cols => ans_eqb a (ARows cols (rows_of t (d_data w)))
-                       | None => is_error a
-                       end
-           | None => is_error a
-           end
-         | _ => match a with ARows _ _ | AHist _ _ => want_commit r v t a | _ => true end   (* refusing is fine; rows must be the right ones *)
-         end
-x    if revdb_denotes r v then want_commit r v t a
-    else match (norm_base r (fst v), snd v) with
-         | (BBranch b, []) =>                         (* dirty branch: `db/branch` is the branch's working set *)
-           match branch_working r b with
-           | Some w => match assoc t (d_schema w) with
-                       | Some cols => ans_eqb a (ARows cols (rows_of t (d_data w)))
-                       | None => is_error a
-                       end
-           | None => is_error a
-           end
-         | _ => match a with ARows _ _ | AHist _ _ => want_commit r v t a | _ => true end   (* refusing is fine; rows must be the right ones *)
-         end
-     if revdb_denotes r v then want_commit r v t a
-    else match (norm_base r (fst v), snd v) with
-         | (BBranch b, []) =>                         (* dirty branch: `db/branch` is the branch's working set *)
-           match branch_working r b with
-           | Some w => match assoc t (d_schema w) with
-                       | Some cols => ans_eqb a (ARows cols (rows_of t (d_data w)))
-                       | None => is_error a
-                       end
-           | None => is_error a
-           end
-         | _ => match a with ARows _ _ | AHist _ _ => want_commit r v t a | _ => true end   (* refusing is fine; rows must be the right ones *)
-         end
-:    if revdb_denotes r v then want_commit r v t a
-    else match (norm_base r (fst v), snd v) with
-         | (BBranch b, []) =>                         (* dirty branch: `db/branch` is the branch's working set *)
-           match branch_working r b with
-           | Some w => match assoc t (d_schema w) with
-                       | Some cols => ans_eqb a (ARows cols (rows_of t (d_data w)))
-                       | None => is_error a
-                       end
-           | None => is_error a
-           end
-         | _ => match a with ARows _ _ | AHist _ _ => want_commit r v t a | _ => true end   (* refusing is fine; rows must be the right ones *)
-         end
-:    if revdb_denotes r v then want_commit r v t a
-    else match (norm_base r (fst v), snd v) with
-         | (BBranch b, []) =>                         (* dirty branch: `db/branch` is the branch's working set *)
-           match branch_working r b with
-           | Some w => match assoc t (d_schema w) with
-                       | Some cols => ans_eqb a (ARows cols (rows_of t (d_data w)))
-                       | None => is_error a
-                       end
-           | None => is_error a
-           end
-         | _ => match a with ARows _ _ | AHist _ _ => want_commit r v t a | _ => true end   (* refusing is fine; rows must be the right ones *)
-         end
-     if revdb_denotes r v then want_commit r v t a
-    else match (norm_base r (fst v), snd v) with
-         | (BBranch b, []) =>                         (* dirty branch: `db/branch` is the branch's working set *)
-           match branch_working r b with
-           | Some w => match assoc t (d_schema w) with
-                       | Some cols => ans_eqb a (ARows cols (rows_of t (d_data w)))
-                       | None => is_error a
-                       end
-           | None => is_error a
-           end
-         | _ => match a with ARows _ _ | AHist _ _ => want_commit r v t a | _ => true end   (* refusing is fine; rows must be the right ones *)
-         end
-a    if revdb_denotes r v then want_commit r v t a
-    else match (norm_base r (fst v), snd v) with
-         | (BBranch b, []) =>                         (* dirty branch: `db/branch` is the branch's working set *)
-           match branch_working r b with
-           | Some w => match assoc t (d_schema w) with
-                       | Some cols => ans_eqb a (ARows cols (rows_of t (d_data w)))
-                       | None => is_error a
-                       end
-           | None => is_error a
-           end
-         | _ => match a with ARows _ _ | AHist _ _ => want_commit r v t a | _ => true end   (* refusing is fine; rows must be the right ones *)
-         end
-'    if revdb_denotes r v then want_commit r v t a
-    else match (norm_base r (fst v), snd v) with
-         | (BBranch b, []) =>                         (* dirty branch: `db/branch` is the branch's working set *)
-           match branch_working r b with
-           | Some w => match assoc t (d_schema w) with
-                       | Some cols => ans_eqb a (ARows cols (rows_of t (d_data w)))
-                       | None => is_error a
-                       end
-           | None => is_error a
-           end
-         | _ => match a with ARows _ _ | AHist _ _ => want_commit r v t a | _ => true end   (* refusing is fine; rows must be the right ones *)
-         end
-,    if revdb_denotes r v then want_commit r v t a
-    else match (norm_base r (fst v), snd v) with
-         | (BBranch b, []) =>                         (* dirty branch: `db/branch` is the branch's working set *)
-           match branch_working r b with
-           | Some w => match assoc t (d_schema w) with
-                       | Some cols => ans_eqb a (ARows cols (rows_of t (d_data w)))
-                       | None => is_error a
-                       end
-           | None => is_error a
-           end
-         | _ => match a with ARows _ _ | AHist _ _ => want_commit r v t a | _ => true end   (* refusing is fine; rows must be the right ones *)
-         end
-     if revdb_denotes r v then want_commit r v t a
-    else match (norm_base r (fst v), snd v) with
-         | (BBranch b, []) =>                         (* dirty branch: `db/branch` is the branch's working set *)
-           match branch_working r b with
-           | Some w => match assoc t (d_schema w) with
-                       | Some cols => ans_eqb a (ARows cols (rows_of t (d_data w)))
-                       | None => is_error a
-                       end
-           | None => is_error a
-           end
-         | _ => match a with ARows _ _ | AHist _ _ => want_commit r v t a | _ => true end   (* refusing is fine; rows must be the right ones *)
-         end
-y    if revdb_denotes r v then want_commit r v t a
-    else match (norm_base r (fst v), snd v) with
-         | (BBranch b, []) =>                         (* dirty branch: `db/branch` is the branch's working set *)
-           match branch_working r b with
-           | Some w => match assoc t (d_schema w) with
-                       | Some cols => ans_eqb a (ARows cols (rows_of t (d_data w)))
-                       | None => is_error a
-                       end
-           | None => is_error a
-           end
-         | _ => match a with ARows _ _ | AHist _ _ => want_commit r v t a | _ => true end   (* refusing is fine; rows must be the right ones *)
-         end
-     if revdb_denotes r v then want_commit r v t a
-    else match (norm_base r (fst v), snd v) with
-         | (BBranch b, []) =>                         (* dirty branch: `db/branch` is the branch's working set *)
-           match branch_working r b with
-           | Some w => match assoc t (d_schema w) with
-                       | Some cols => ans_eqb a (ARows cols (rows_of t (d_data w)))
-                       | None => is_error a
-                       end
-           | None => is_error a
-           end
-         | _ => match a with ARows _ _ | AHist _ _ => want_commit r v t a | _ => true end   (* refusing is fine; rows must be the right ones *)
-         end
-:    if revdb_denotes r v then want_commit r v t a
-    else match (norm_base r (fst v), snd v) with
-         | (BBranch b, []) =>                         (* dirty branch: `db/branch` is the branch's working set *)
-           match branch_working r b with
-           | Some w => match assoc t (d_schema w) with
-                       | Some cols => ans_eqb a (ARows cols (rows_of t (d_data w)))
-                       | None => is_error a
-                       end
-           | None => is_error a
-           end
-         | _ => match a with ARows _ _ | AHist _ _ => want_commit r v t a | _ => true end   (* refusing is fine; rows must be the right ones *)
-         end
-:    if revdb_denotes r v then want_commit r v t a
-    else match (norm_base r (fst v), snd v) with
-         | (BBranch b, []) =>                         (* dirty branch: `db/branch` is the branch's working set *)
-           match branch_working r b with
-           | Some w => match assoc t (d_schema w) with
-                       | Some cols => ans_eqb a (ARows cols (rows_of t (d_data w)))
-                       | None => is_error a
-                       end
-           | None => is_error a
-           end
-         | _ => match a with ARows _ _ | AHist _ _ => want_commit r v t a | _ => true end   (* refusing is fine; rows must be the right ones *)
-         end
-     if revdb_denotes r v then want_commit r v t a
-    else match (norm_base r (fst v), snd v) with
-         | (BBranch b, []) =>                         (* dirty branch: `db/branch` is the branch's working set *)
-           match branch_working r b with
-           | Some w => match assoc t (d_schema w) with
-                       | Some cols => ans_eqb a (ARows cols (rows_of t (d_data w)))
-                       | None => is_error a
-                       end
-           | None => is_error a
-           end
-         | _ => match a with ARows _ _ | AHist _ _ => want_commit r v t a | _ => true end   (* refusing is fine; rows must be the right ones *)
-         end
-b    if revdb_denotes r v then want_commit r v t a
-    else match (norm_base r (fst v), snd v) with
-         | (BBranch b, []) =>                         (* dirty branch: `db/branch` is the branch's working set *)
-           match branch_working r b with
-           | Some w => match assoc t (d_schema w) with
-                       | Some cols => ans_eqb a (ARows cols (rows_of t (d_data w)))
-                       | None => is_error a
-                       end
-           | None => is_error a
-           end
-         | _ => match a with ARows _ _ | AHist _ _ => want_commit r v t a | _ => true end   (* refusing is fine; rows must be the right ones *)
-         end
-'    if revdb_denotes r v then want_commit r v t a
-    else match (norm_base r (fst v), snd v) with
-         | (BBranch b, []) =>                         (* dirty branch: `db/branch` is the branch's working set *)
-           match branch_working r b with
-           | Some w => match assoc t (d_schema w) with
-                       | Some cols => ans_eqb a (ARows cols (rows_of t (d_data w)))
-                       | None => is_error a
-                       end
-           | None => is_error a
-           end
-         | _ => match a with ARows _ _ | AHist _ _ => want_commit r v t a | _ => true end   (* refusing is fine; rows must be the right ones *)
-         end
-     if revdb_denotes r v then want_commit r v t a
-    else match (norm_base r (fst v), snd v) with
-         | (BBranch b, []) =>                         (* dirty branch: `db/branch` is the branch's working set *)
-           match branch_working r b with
-           | Some w => match assoc t (d_schema w) with
-                       | Some cols => ans_eqb a (ARows cols (rows_of t (d_data w)))
-                       | None => is_error a
-                       end
-           | None => is_error a
-           end
-         | _ => match a with ARows _ _ | AHist _ _ => want_commit r v t a | _ => true end   (* refusing is fine; rows must be the right ones *)
-         end
-=    if revdb_denotes r v then want_commit r v t a
-    else match (norm_base r (fst v), snd v) with
-         | (BBranch b, []) =>                         (* dirty branch: `db/branch` is the branch's working set *)
-           match branch_working r b with
-           | Some w => match assoc t (d_schema w) with
-                       | Some cols => ans_eqb a (ARows cols (rows_of t (d_data w)))
-                       | None => is_error a
-                       end
-           | None => is_error a
-           end
-         | _ => match a with ARows _ _ | AHist _ _ => want_commit r v t a | _ => true end   (* refusing is fine; rows must be the right ones *)
-         end
->    if revdb_denotes r v then want_commit r v t a
-    else match (norm_base r (fst v), snd v) with
-         | (BBranch b, []) =>                         (* dirty branch: `db/branch` is the branch's working set *)
-           match branch_working r b with
-           | Some w => match assoc t (d_schema w) with
-                       | Some cols => ans_eqb a (ARows cols (rows_of t (d_data w)))
-                       | None => is_error a
-                       end
-           | None => is_error a
-           end
-         | _ => match a with ARows _ _ | AHist _ _ => want_commit r v t a | _ => true end   (* refusing is fine; rows must be the right ones *)
-         end
-     if revdb_denotes r v then want_commit r v t a
-    else match (norm_base r (fst v), snd v) with
-         | (BBranch b, []) =>                         (* dirty branch: `db/branch` is the branch's working set *)
-           match branch_working r b with
-           | Some w => match assoc t (d_schema w) with
-                       | Some cols => ans_eqb a (ARows cols (rows_of t (d_data w)))
-                       | None => is_error a
-                       end
-           | None => is_error a
-           end
-         | _ => match a with ARows _ _ | AHist _ _ => want_commit r v t a | _ => true end   (* refusing is fine; rows must be the right ones *)
-         end
-a    if revdb_denotes r v then want_commit r v t a
-    else match (norm_base r (fst v), snd v) with
-         | (BBranch b, []) =>                         (* dirty branch: `db/branch` is the branch's working set *)
-           match branch_working r b with
-           | Some w => match assoc t (d_schema w) with
-                       | Some cols => ans_eqb a (ARows cols (rows_of t (d_data w)))
-                       | None => is_error a
-                       end
-           | None => is_error a
-           end
-         | _ => match a with ARows _ _ | AHist _ _ => want_commit r v t a | _ => true end   (* refusing is fine; rows must be the right ones *)
-         end
-n    if revdb_denotes r v then want_commit r v t a
-    else match (norm_base r (fst v), snd v) with
-         | (BBranch b, []) =>                         (* dirty branch: `db/branch` is the branch's working set *)
-           match branch_working r b with
-           | Some w => match assoc t (d_schema w) with
-                       | Some cols => ans_eqb a (ARows cols (rows_of t (d_data w)))
-                       | None => is_error a
-                       end
-           | None => is_error a
-           end
-         | _ => match a with ARows _ _ | AHist _ _ => want_commit r v t a | _ => true end   (* refusing is fine; rows must be the right ones *)
-         end
-s    if revdb_denotes r v then want_commit r v t a
-    else match (norm_base r (fst v), snd v) with
-         | (BBranch b, []) =>                         (* dirty branch: `db/branch` is the branch's working set *)
-           match branch_working r b with
-           | Some w => match assoc t (d_schema w) with
-                       | Some cols => ans_eqb a (ARows cols (rows_of t (d_data w)))
-                       | None => is_error a
-                       end
-           | None => is_error a
-           end
-         | _ => match a with ARows _ _ | AHist _ _ => want_commit r v t a | _ => true end   (* refusing is fine; rows must be the right ones *)
-         end
-_    if revdb_denotes r v then want_commit r v t a
-    else match (norm_base r (fst v), snd v) with
-         | (BBranch b, []) =>                         (* dirty branch: `db/branch` is the branch's working set *)
-           match branch_working r b with
-           | Some w => match assoc t (d_schema w) with
-                       | Some cols => ans_eqb a (ARows cols (rows_of t (d_data w)))
-                       | None => is_error a
-                       end
-           | None => is_error a
-           end
-         | _ => match a with ARows _ _ | AHist _ _ => want_commit r v t a | _ => true end   (* refusing is fine; rows must be the right ones *)
-         end
-e    if revdb_denotes r v then want_commit r v t a
-    else match (norm_base r (fst v), snd v) with
-         | (BBranch b, []) =>                         (* dirty branch: `db/branch` is the branch's working set *)
-           match branch_working r b with
-           | Some w => match assoc t (d_schema w) with
-                       | Some cols => ans_eqb a (ARows cols (rows_of t (d_data w)))
-                       | None => is_error a
-                       end
-           | None => is_error a
-           end
-         | _ => match a with ARows _ _ | AHist _ _ => want_commit r v t a | _ => true end   (* refusing is fine; rows must be the right ones *)
-         end
-q    if revdb_denotes r v then want_commit r v t a
-    else match (norm_base r (fst v), snd v) with
-         | (BBranch b, []) =>                         (* dirty branch: `db/branch` is the branch's working set *)
-           match branch_working r b with
-           | Some w => match assoc t (d_schema w) with
-                       | Some cols => ans_eqb a (ARows cols (rows_of t (d_data w)))
-                       | None => is_error a
-                       end
-           | None => is_error a
-           end
-         | _ => match a with ARows _ _ | AHist _ _ => want_commit r v t a | _ => true end   (* refusing is fine; rows must be the right ones *)
-         end
-b    if revdb_denotes r v then want_commit r v t a
-    else match (norm_base r (fst v), snd v) with
-         | (BBranch b, []) =>                         (* dirty branch: `db/branch` is the branch's working set *)
-           match branch_working r b with
-           | Some w => match assoc t (d_schema w) with
-                       | Some cols => ans_eqb a (ARows cols (rows_of t (d_data w)))
-                       | None => is_error a
-                       end
-           | None => is_error a
-           end
-         | _ => match a with ARows _ _ | AHist _ _ => want_commit r v t a | _ => true end   (* refusing is fine; rows must be the right ones *)
-         end
-     if revdb_denotes r v then want_commit r v t a
-    else match (norm_base r (fst v), snd v) with
-         | (BBranch b, []) =>                         (* dirty branch: `db/branch` is the branch's working set *)
-           match branch_working r b with
-           | Some w => match assoc t (d_schema w) with
-                       | Some cols => ans_eqb a (ARows cols (rows_of t (d_data w)))
-                       | None => is_error a
-                       end
-           | None => is_error a
-           end
-         | _ => match a with ARows _ _ | AHist _ _ => want_commit r v t a | _ => true end   (* refusing is fine; rows must be the right ones *)
-         end
-x    if revdb_denotes r v then want_commit r v t a
-    else match (norm_base r (fst v), snd v) with
-         | (BBranch b, []) =>                         (* dirty branch: `db/branch` is the branch's working set *)
-           match branch_working r b with
-           | Some w => match assoc t (d_schema w) with
-                       | Some cols => ans_eqb a (ARows cols (rows_of t (d_data w)))
-                       | None => is_error a
-                       end
-           | None => is_error a
-           end
-         | _ => match a with ARows _ _ | AHist _ _ => want_commit r v t a | _ => true end   (* refusing is fine; rows must be the right ones *)
-         end
-     if revdb_denotes r v then want_commit r v t a
-    else match (norm_base r (fst v), snd v) with
-         | (BBranch b, []) =>                         (* dirty branch: `db/branch` is the branch's working set *)
-           match branch_working r b with
-           | Some w => match assoc t (d_schema w) with
-                       | Some cols => ans_eqb a (ARows cols (rows_of t (d_data w)))
-                       | None => is_error a
-                       end
-           | None => is_error a
-           end
-         | _ => match a with ARows _ _ | AHist _ _ => want_commit r v t a | _ => true end   (* refusing is fine; rows must be the right ones *)
-         end
-y    if revdb_denotes r v then want_commit r v t a
-    else match (norm_base r (fst v), snd v) with
-         | (BBranch b, []) =>                         (* dirty branch: `db/branch` is the branch's working set *)
-           match branch_working r b with
-           | Some w => match assoc t (d_schema w) with
-                       | Some cols => ans_eqb a (ARows cols (rows_of t (d_data w)))
-                       | None => is_error a
-                       end
-           | None => is_error a
-           end
-         | _ => match a with ARows _ _ | AHist _ _ => want_commit r v t a | _ => true end   (* refusing is fine; rows must be the right ones *)
-         end
-     if revdb_denotes r v then want_commit r v t a
-    else match (norm_base r (fst v), snd v) with
-         | (BBranch b, []) =>                         (* dirty branch: `db/branch` is the branch's working set *)
-           match branch_working r b with
-           | Some w => match assoc t (d_schema w) with
-                       | Some cols => ans_eqb a (ARows cols (rows_of t (d_data w)))
-                       | None => is_error a
-                       end
-           | None => is_error a
-           end
-         | _ => match a with ARows _ _ | AHist _ _ => want_commit r v t a | _ => true end   (* refusing is fine; rows must be the right ones *)
-         end
-&    if revdb_denotes r v then want_commit r v t a
-    else match (norm_base r (fst v), snd v) with
-         | (BBranch b, []) =>                         (* dirty branch: `db/branch` is the branch's working set *)
-           match branch_working r b with
-           | Some w => match assoc t (d_schema w) with
-                       | Some cols => ans_eqb a (ARows cols (rows_of t (d_data w)))
-                       | None => is_error a
-                       end
-           | None => is_error a
-           end
-         | _ => match a with ARows _ _ | AHist _ _ => want_commit r v t a | _ => true end   (* refusing is fine; rows must be the right ones *)
-         end
-&    if revdb_denotes r v then want_commit r v t a
-    else match (norm_base r (fst v), snd v) with
-         | (BBranch b, []) =>                         (* dirty branch: `db/branch` is the branch's working set *)
-           match branch_working r b with
-           | Some w => match assoc t (d_schema w) with
-                       | Some cols => ans_eqb a (ARows cols (rows_of t (d_data w)))
-                       | None => is_error a
-                       end
-           | None => is_error a
-           end
-         | _ => match a with ARows _ _ | AHist _ _ => want_commit r v t a | _ => true end   (* refusing is fine; rows must be the right ones *)
-         end
-     if revdb_denotes r v then want_commit r v t a
-    else match (norm_base r (fst v), snd v) with
-         | (BBranch b, []) =>                         (* dirty branch: `db/branch` is the branch's working set *)
-           match branch_working r b with
-           | Some w => match assoc t (d_schema w) with
-                       | Some cols => ans_eqb a (ARows cols (rows_of t (d_data w)))
-                       | None => is_error a
-                       end
-           | None => is_error a
-           end
-         | _ => match a with ARows _ _ | AHist _ _ => want_commit r v t a | _ => true end   (* refusing is fine; rows must be the right ones *)
-         end
-o    if revdb_denotes r v then want_commit r v t a
-    else match (norm_base r (fst v), snd v) with
-         | (BBranch b, []) =>                         (* dirty branch: `db/branch` is the branch's working set *)
-           match branch_working r b with
-           | Some w => match assoc t (d_schema w) with
-                       | Some cols => ans_eqb a (ARows cols (rows_of t (d_data w)))
-                       | None => is_error a
-                       end
-           | None => is_error a
-           end
-         | _ => match a with ARows _ _ | AHist _ _ => want_commit r v t a | _ => true end   (* refusing is fine; rows must be the right ones *)
-         end
-b    if revdb_denotes r v then want_commit r v t a
-    else match (norm_base r (fst v), snd v) with
-         | (BBranch b, []) =>                         (* dirty branch: `db/branch` is the branch's working set *)
-           match branch_working r b with
-           | Some w => match assoc t (d_schema w) with
-                       | Some cols => ans_eqb a (ARows cols (rows_of t (d_data w)))
-                       | None => is_error a
-                       end
-           | None => is_error a
-           end
-         | _ => match a with ARows _ _ | AHist _ _ => want_commit r v t a | _ => true end   (* refusing is fine; rows must be the right ones *)
-         end
-s    if revdb_denotes r v then want_commit r v t a
-    else match (norm_base r (fst v), snd v) with
-         | (BBranch b, []) =>                         (* dirty branch: `db/branch` is the branch's working set *)
-           match branch_working r b with
-           | Some w => match assoc t (d_schema w) with
-                       | Some cols => ans_eqb a (ARows cols (rows_of t (d_data w)))
-                       | None => is_error a
-                       end
-           | None => is_error a
-           end
-         | _ => match a with ARows _ _ | AHist _ _ => want_commit r v t a | _ => true end   (* refusing is fine; rows must be the right ones *)
-         end
-_    if revdb_denotes r v then want_commit r v t a
-    else match (norm_base r (fst v), snd v) with
-         | (BBranch b, []) =>                         (* dirty branch: `db/branch` is the branch's working set *)
-           match branch_working r b with
-           | Some w => match assoc t (d_schema w) with
-                       | Some cols => ans_eqb a (ARows cols (rows_of t (d_data w)))
-                       | None => is_error a
-                       end
-           | None => is_error a
-           end
-         | _ => match a with ARows _ _ | AHist _ _ => want_commit r v t a | _ => true end   (* refusing is fine; rows must be the right ones *)
-         end
-e    if revdb_denotes r v then want_commit r v t a
-    else match (norm_base r (fst v), snd v) with
-         | (BBranch b, []) =>                         (* dirty branch: `db/branch` is the branch's working set *)
-           match branch_working r b with
-           | Some w => match assoc t (d_schema w) with
-                       | Some cols => ans_eqb a (ARows cols (rows_of t (d_data w)))
-                       | None => is_error a
-                       end
-           | None => is_error a
-           end
-         | _ => match a with ARows _ _ | AHist _ _ => want_commit r v t a | _ => true end   (* refusing is fine; rows must be the right ones *)
-         end
-q    if revdb_denotes r v then want_commit r v t a
-    else match (norm_base r (fst v), snd v) with
-         | (BBranch b, []) =>                         (* dirty branch: `db/branch` is the branch's working set *)
-           match branch_working r b with
-           | Some w => match assoc t (d_schema w) with
-                       | Some cols => ans_eqb a (ARows cols (rows_of t (d_data w)))
-                       | None => is_error a
-                       end
-           | None => is_error a
-           end
-         | _ => match a with ARows _ _ | AHist _ _ => want_commit r v t a | _ => true end   (* refusing is fine; rows must be the right ones *)
-         end
-b    if revdb_denotes r v then want_commit r v t a
-    else match (norm_base r (fst v), snd v) with
-         | (BBranch b, []) =>                         (* dirty branch: `db/branch` is the branch's working set *)
-           match branch_working r b with
-           | Some w => match assoc t (d_schema w) with
-                       | Some cols => ans_eqb a (ARows cols (rows_of t (d_data w)))
-                       | None => is_error a
-                       end
-           | None => is_error a
-           end
-         | _ => match a with ARows _ _ | AHist _ _ => want_commit r v t a | _ => true end   (* refusing is fine; rows must be the right ones *)
-         end
-     if revdb_denotes r v then want_commit r v t a
-    else match (norm_base r (fst v), snd v) with
-         | (BBranch b, []) =>                         (* dirty branch: `db/branch` is the branch's working set *)
-           match branch_working r b with
-           | Some w => match assoc t (d_schema w) with
-                       | Some cols => ans_eqb a (ARows cols (rows_of t (d_data w)))
-                       | None => is_error a
-                       end
-           | None => is_error a
-           end
-         | _ => match a with ARows _ _ | AHist _ _ => want_commit r v t a | _ => true end   (* refusing is fine; rows must be the right ones *)
-         end
-a    if revdb_denotes r v then want_commit r v t a
-    else match (norm_base r (fst v), snd v) with
-         | (BBranch b, []) =>                         (* dirty branch: `db/branch` is the branch's working set *)
-           match branch_working r b with
-           | Some w => match assoc t (d_schema w) with
-                       | Some cols => ans_eqb a (ARows cols (rows_of t (d_data w)))
-                       | None => is_error a
-                       end
-           | None => is_error a
-           end
-         | _ => match a with ARows _ _ | AHist _ _ => want_commit r v t a | _ => true end   (* refusing is fine; rows must be the right ones *)
-         end
-'    if revdb_denotes r v then want_commit r v t a
-    else match (norm_base r (fst v), snd v) with
-         | (BBranch b, []) =>                         (* dirty branch: `db/branch` is the branch's working set *)
-           match branch_working r b with
-           | Some w => match assoc t (d_schema w) with
-                       | Some cols => ans_eqb a (ARows cols (rows_of t (d_data w)))
-                       | None => is_error a
-                       end
-           | None => is_error a
-           end
-         | _ => match a with ARows _ _ | AHist _ _ => want_commit r v t a | _ => true end   (* refusing is fine; rows must be the right ones *)
-         end
-     if revdb_denotes r v then want_commit r v t a
-    else match (norm_base r (fst v), snd v) with
-         | (BBranch b, []) =>                         (* dirty branch: `db/branch` is the branch's working set *)
-           match branch_working r b with
-           | Some w => match assoc t (d_schema w) with
-                       | Some cols => ans_eqb a (ARows cols (rows_of t (d_data w)))
-                       | None => is_error a
-                       end
-           | None => is_error a
-           end
-         | _ => match a with ARows _ _ | AHist _ _ => want_commit r v t a | _ => true end   (* refusing is fine; rows must be the right ones *)
-         end
-b    if revdb_denotes r v then want_commit r v t a
-    else match (norm_base r (fst v), snd v) with
-         | (BBranch b, []) =>                         (* dirty branch: `db/branch` is the branch's working set *)
-           match branch_working r b with
-           | Some w => match assoc t (d_schema w) with
-                       | Some cols => ans_eqb a (ARows cols (rows_of t (d_data w)))
-                       | None => is_error a
-                       end
-           | None => is_error a
-           end
-         | _ => match a with ARows _ _ | AHist _ _ => want_commit r v t a | _ => true end   (* refusing is fine; rows must be the right ones *)
-         end
-'    if revdb_denotes r v then want_commit r v t a
-    else match (norm_base r (fst v), snd v) with
-         | (BBranch b, []) =>                         (* dirty branch: `db/branch` is the branch's working set *)
-           match branch_working r b with
-           | Some w => match assoc t (d_schema w) with
-                       | Some cols => ans_eqb a (ARows cols (rows_of t (d_data w)))
-                       | None => is_error a
-                       end
-           | None => is_error a
-           end
-         | _ => match a with ARows _ _ | AHist _ _ => want_commit r v t a | _ => true end   (* refusing is fine; rows must be the right ones *)
-         end
-
-    if revdb_denotes r v then want_commit r v t a
-    else match (norm_base r (fst v), snd v) with
-         | (BBranch b, []) =>                         (* dirty branch: `db/branch` is the branch's working set *)
-           match branch_working r b with
-           | Some w => match assoc t (d_schema w) with
-                       | Some cols => ans_eqb a (ARows cols (rows_of t (d_data w)))
-                       | None => is_error a
-                       end
-           | None => is_error a
-           end
-         | _ => match a with ARows _ _ | AHist _ _ => want_commit r v t a | _ => true end   (* refusing is fine; rows must be the right ones *)
-         end
-     if revdb_denotes r v then want_commit r v t a
-    else match (norm_base r (fst v), snd v) with
-         | (BBranch b, []) =>                         (* dirty branch: `db/branch` is the branch's working set *)
-           match branch_working r b with
-           | Some w => match assoc t (d_schema w) with
-                       | Some cols => ans_eqb a (ARows cols (rows_of t (d_data w)))
-                       | None => is_error a
-                       end
-           | None => is_error a
-           end
-         | _ => match a with ARows _ _ | AHist _ _ => want_commit r v t a | _ => true end   (* refusing is fine; rows must be the right ones *)
-         end
-     if revdb_denotes r v then want_commit r v t a
-    else match (norm_base r (fst v), snd v) with
-         | (BBranch b, []) =>                         (* dirty branch: `db/branch` is the branch's working set *)
-           match branch_working r b with
-           | Some w => match assoc t (d_schema w) with
-                       | Some cols => ans_eqb a (ARows cols (rows_of t (d_data w)))
-                       | None => is_error a
-                       end
-           | None => is_error a
-           end
-         | _ => match a with ARows _ _ | AHist _ _ => want_commit r v t a | _ => true end   (* refusing is fine; rows must be the right ones *)
-         end
-|    if revdb_denotes r v then want_commit r v t a
-    else match (norm_base r (fst v), snd v) with
-         | (BBranch b, []) =>                         (* dirty branch: `db/branch` is the branch's working set *)
-           match branch_working r b with
-           | Some w => match assoc t (d_schema w) with
-                       | Some cols => ans_eqb a (ARows cols (rows_of t (d_data w)))
-                       | None => is_error a
-                       end
-           | None => is_error a
-           end
-         | _ => match a with ARows _ _ | AHist _ _ => want_commit r v t a | _ => true end   (* refusing is fine; rows must be the right ones *)
-         end
-     if revdb_denotes r v then want_commit r v t a
-    else match (norm_base r (fst v), snd v) with
-         | (BBranch b, []) =>                         (* dirty branch: `db/branch` is the branch's working set *)
-           match branch_working r b with
-           | Some w => match assoc t (d_schema w) with
-                       | Some cols => ans_eqb a (ARows cols (rows_of t (d_data w)))
-                       | None => is_error a
-                       end
-           | None => is_error a
-           end
-         | _ => match a with ARows _ _ | AHist _ _ => want_commit r v t a | _ => true end   (* refusing is fine; rows must be the right ones *)
-         end
-_    if revdb_denotes r v then want_commit r v t a
-    else match (norm_base r (fst v), snd v) with
-         | (BBranch b, []) =>                         (* dirty branch: `db/branch` is the branch's working set *)
-           match branch_working r b with
-           | Some w => match assoc t (d_schema w) with
-                       | Some cols => ans_eqb a (ARows cols (rows_of t (d_data w)))
-                       | None => is_error a
-                       end
-           | None => is_error a
-           end
-         | _ => match a with ARows _ _ | AHist _ _ => want_commit r v t a | _ => true end   (* refusing is fine; rows must be the right ones *)
-         end
-,    if revdb_denotes r v then want_commit r v t a
-    else match (norm_base r (fst v), snd v) with
-         | (BBranch b, []) =>                         (* dirty branch: `db/branch` is the branch's working set *)
-           match branch_working r b with
-           | Some w => match assoc t (d_schema w) with
-                       | Some cols => ans_eqb a (ARows cols (rows_of t (d_data w)))
-                       | None => is_error a
-                       end
-           | None => is_error a
-           end
-         | _ => match a with ARows _ _ | AHist _ _ => want_commit r v t a | _ => true end   (* refusing is fine; rows must be the right ones *)
-         end
-     if revdb_denotes r v then want_commit r v t a
-    else match (norm_base r (fst v), snd v) with
-         | (BBranch b, []) =>                         (* dirty branch: `db/branch` is the branch's working set *)
-           match branch_working r b with
-           | Some w => match assoc t (d_schema w) with
-                       | Some cols => ans_eqb a (ARows cols (rows_of t (d_data w)))
-                       | None => is_error a
-                       end
-           | None => is_error a
-           end
-         | _ => match a with ARows _ _ | AHist _ _ => want_commit r v t a | _ => true end   (* refusing is fine; rows must be the right ones *)
-         end
-_    if revdb_denotes r v then want_commit r v t a
-    else match (norm_base r (fst v), snd v) with
-         | (BBranch b, []) =>                         (* dirty branch: `db/branch` is the branch's working set *)
-           match branch_working r b with
-           | Some w => match assoc t (d_schema w) with
-                       | Some cols => ans_eqb a (ARows cols (rows_of t (d_data w)))
-                       | None => is_error a
-                       end
-           | None => is_error a
-           end
-         | _ => match a with ARows _ _ | AHist _ _ => want_commit r v t a | _ => true end   (* refusing is fine; rows must be the right ones *)
-         end
-     if revdb_denotes r v then want_commit r v t a
-    else match (norm_base r (fst v), snd v) with
-         | (BBranch b, []) =>                         (* dirty branch: `db/branch` is the branch's working set *)
-           match branch_working r b with
-           | Some w => match assoc t (d_schema w) with
-                       | Some cols => ans_eqb a (ARows cols (rows_of t (d_data w)))
-                       | None => is_error a
-                       end
-           | None => is_error a
-           end
-         | _ => match a with ARows _ _ | AHist _ _ => want_commit r v t a | _ => true end   (* refusing is fine; rows must be the right ones *)
-         end
-=    if revdb_denotes r v then want_commit r v t a
-    else match (norm_base r (fst v), snd v) with
-         | (BBranch b, []) =>                         (* dirty branch: `db/branch` is the branch's working set *)
-           match branch_working r b with
-           | Some w => match assoc t (d_schema w) with
-                       | Some cols => ans_eqb a (ARows cols (rows_of t (d_data w)))
-                       | None => is_error a
-                       end
-           | None => is_error a
-           end
-         | _ => match a with ARows _ _ | AHist _ _ => want_commit r v t a | _ => true end   (* refusing is fine; rows must be the right ones *)
-         end
->    if revdb_denotes r v then want_commit r v t a
-    else match (norm_base r (fst v), snd v) with
-         | (BBranch b, []) =>                         (* dirty branch: `db/branch` is the branch's working set *)
-           match branch_working r b with
-           | Some w => match assoc t (d_schema w) with
-                       | Some cols => ans_eqb a (ARows cols (rows_of t (d_data w)))
-                       | None => is_error a
-                       end
-           | None => is_error a
-           end
-         | _ => match a with ARows _ _ | AHist _ _ => want_commit r v t a | _ => true end   (* refusing is fine; rows must be the right ones *)
-         end
-     if revdb_denotes r v then want_commit r v t a
-    else match (norm_base r (fst v), snd v) with
-         | (BBranch b, []) =>                         (* dirty branch: `db/branch` is the branch's working set *)
-           match branch_working r b with
-           | Some w => match assoc t (d_schema w) with
-                       | Some cols => ans_eqb a (ARows cols (rows_of t (d_data w)))
-                       | None => is_error a
-                       end
-           | None => is_error a
-           end
-         | _ => match a with ARows _ _ | AHist _ _ => want_commit r v t a | _ => true end   (* refusing is fine; rows must be the right ones *)
-         end
-f    if revdb_denotes r v then want_commit r v t a
-    else match (norm_base r (fst v), snd v) with
-         | (BBranch b, []) =>                         (* dirty branch: `db/branch` is the branch's working set *)
-           match branch_working r b with
-           | Some w => match assoc t (d_schema w) with
-                       | Some cols => ans_eqb a (ARows cols (rows_of t (d_data w)))
-                       | None => is_error a
-                       end
-           | None => is_error a
-           end
-         | _ => match a with ARows _ _ | AHist _ _ => want_commit r v t a | _ => true end   (* refusing is fine; rows must be the right ones *)
-         end
-a    if revdb_denotes r v then want_commit r v t a
-    else match (norm_base r (fst v), snd v) with
-         | (BBranch b, []) =>                         (* dirty branch: `db/branch` is the branch's working set *)
-           match branch_working r b with
-           | Some w => match assoc t (d_schema w) with
-                       | Some cols => ans_eqb a (ARows cols (rows_of t (d_data w)))
-                       | None => is_error a
-                       end
-           | None => is_error a
-           end
-         | _ => match a with ARows _ _ | AHist _ _ => want_commit r v t a | _ => true end   (* refusing is fine; rows must be the right ones *)
-         end
-l    if revdb_denotes r v then want_commit r v t a
-    else match (norm_base r (fst v), snd v) with
-         | (BBranch b, []) =>                         (* dirty branch: `db/branch` is the branch's working set *)
-           match branch_working r b with
-           | Some w => match assoc t (d_schema w) with
-                       | Some cols => ans_eqb a (ARows cols (rows_of t (d_data w)))
-                       | None => is_error a
-                       end
-           | None => is_error a
-           end
-         | _ => match a with ARows _ _ | AHist _ _ => want_commit r v t a | _ => true end   (* refusing is fine; rows must be the right ones *)
-         end
-s    if revdb_denotes r v then want_commit r v t a
-    else match (norm_base r (fst v), snd v) with
-         | (BBranch b, []) =>                         (* dirty branch: `db/branch` is the branch's working set *)
-           match branch_working r b with
-           | Some w => match assoc t (d_schema w) with
-                       | Some cols => ans_eqb a (ARows cols (rows_of t (d_data w)))
-                       | None => is_error a
-                       end
-           | None => is_error a
-           end
-         | _ => match a with ARows _ _ | AHist _ _ => want_commit r v t a | _ => true end   (* refusing is fine; rows must be the right ones *)
-         end
-e    if revdb_denotes r v then want_commit r v t a
-    else match (norm_base r (fst v), snd v) with
-         | (BBranch b, []) =>                         (* dirty branch: `db/branch` is the branch's working set *)
-           match branch_working r b with
-           | Some w => match assoc t (d_schema w) with
-                       | Some cols => ans_eqb a (ARows cols (rows_of t (d_data w)))
-                       | None => is_error a
-                       end
-           | None => is_error a
-           end
-         | _ => match a with ARows _ _ | AHist _ _ => want_commit r v t a | _ => true end   (* refusing is fine; rows must be the right ones *)
-         end
-
-    if revdb_denotes r v then want_commit r v t a
-    else match (norm_base r (fst v), snd v) with
-         | (BBranch b, []) =>                         (* dirty branch: `db/branch` is the branch's working set *)
-           match branch_working r b with
-           | Some w => match assoc t (d_schema w) with
-                       | Some cols => ans_eqb a (ARows cols (rows_of t (d_data w)))
-                       | None => is_error a
-                       end
-           | None => is_error a
-           end
-         | _ => match a with ARows _ _ | AHist _ _ => want_commit r v t a | _ => true end   (* refusing is fine; rows must be the right ones *)
-         end
-     if revdb_denotes r v then want_commit r v t a
-    else match (norm_base r (fst v), snd v) with
-         | (BBranch b, []) =>                         (* dirty branch: `db/branch` is the branch's working set *)
-           match branch_working r b with
-           | Some w => match assoc t (d_schema w) with
-                       | Some cols => ans_eqb a (ARows cols (rows_of t (d_data w)))
-                       | None => is_error a
-                       end
-           | None => is_error a
-           end
-         | _ => match a with ARows _ _ | AHist _ _ => want_commit r v t a | _ => true end   (* refusing is fine; rows must be the right ones *)
-         end
-     if revdb_denotes r v then want_commit r v t a
-    else match (norm_base r (fst v), snd v) with
-         | (BBranch b, []) =>                         (* dirty branch: `db/branch` is the branch's working set *)
-           match branch_working r b with
-           | Some w => match assoc t (d_schema w) with
-                       | Some cols => ans_eqb a (ARows cols (rows_of t (d_data w)))
-                       | None => is_error a
-                       end
-           | None => is_error a
-           end
-         | _ => match a with ARows _ _ | AHist _ _ => want_commit r v t a | _ => true end   (* refusing is fine; rows must be the right ones *)
-         end
-e    if revdb_denotes r v then want_commit r v t a
-    else match (norm_base r (fst v), snd v) with
-         | (BBranch b, []) =>                         (* dirty branch: `db/branch` is the branch's working set *)
-           match branch_working r b with
-           | Some w => match assoc t (d_schema w) with
-                       | Some cols => ans_eqb a (ARows cols (rows_of t (d_data w)))
-                       | None => is_error a
-                       end
-           | None => is_error a
-           end
-         | _ => match a with ARows _ _ | AHist _ _ => want_commit r v t a | _ => true end   (* refusing is fine; rows must be the right ones *)
-         end
-n    if revdb_denotes r v then want_commit r v t a
-    else match (norm_base r (fst v), snd v) with
-         | (BBranch b, []) =>                         (* dirty branch: `db/branch` is the branch's working set *)
-           match branch_working r b with
-           | Some w => match assoc t (d_schema w) with
-                       | Some cols => ans_eqb a (ARows cols (rows_of t (d_data w)))
-                       | None => is_error a
-                       end
-           | None => is_error a
-           end
-         | _ => match a with ARows _ _ | AHist _ _ => want_commit r v t a | _ => true end   (* refusing is fine; rows must be the right ones *)
-         end
-d    if revdb_denotes r v then want_commit r v t a
-    else match (norm_base r (fst v), snd v) with
-         | (BBranch b, []) =>                         (* dirty branch: `db/branch` is the branch's working set *)
-           match branch_working r b with
-           | Some w => match assoc t (d_schema w) with
-                       | Some cols => ans_eqb a (ARows cols (rows_of t (d_data w)))
-                       | None => is_error a
-                       end
-           | None => is_error a
-           end
-         | _ => match a with ARows _ _ | AHist _ _ => want_commit r v t a | _ => true end   (* refusing is fine; rows must be the right ones *)
-         end
-.    if revdb_denotes r v then want_commit r v t a
-    else match (norm_base r (fst v), snd v) with
-         | (BBranch b, []) =>                         (* dirty branch: `db/branch` is the branch's working set *)
-           match branch_working r b with
-           | Some w => match assoc t (d_schema w) with
-                       | Some cols => ans_eqb a (ARows cols (rows_of t (d_data w)))
-                       | None => is_error a
-                       end
-           | None => is_error a
-           end
-         | _ => match a with ARows _ _ | AHist _ _ => want_commit r v t a | _ => true end   (* refusing is fine; rows must be the right ones *)
-         end
-
-    if revdb_denotes r v then want_commit r v t a
-    else match (norm_base r (fst v), snd v) with
-         | (BBranch b, []) =>                         (* dirty branch: `db/branch` is the branch's working set *)
-           match branch_working r b with
-           | Some w => match assoc t (d_schema w) with
-                       | Some cols => ans_eqb a (ARows cols (rows_of t (d_data w)))
-                       | None => is_error a
-                       end
-           | None => is_error a
-           end
-         | _ => match a with ARows _ _ | AHist _ _ => want_commit r v t a | _ => true end   (* refusing is fine; rows must be the right ones *)
-         end
-
-    if revdb_denotes r v then want_commit r v t a
-    else match (norm_base r (fst v), snd v) with
-         | (BBranch b, []) =>                         (* dirty branch: `db/branch` is the branch's working set *)
-           match branch_working r b with
-           | Some w => match assoc t (d_schema w) with
-                       | Some cols => ans_eqb a (ARows cols (rows_of t (d_data w)))
-                       | None => is_error a
-                       end
-           | None => is_error a
-           end
-         | _ => match a with ARows _ _ | AHist _ _ => want_commit r v t a | _ => true end   (* refusing is fine; rows must be the right ones *)
-         end
-(    if revdb_denotes r v then want_commit r v t a
-    else match (norm_base r (fst v), snd v) with
-         | (BBranch b, []) =>                         (* dirty branch: `db/branch` is the branch's working set *)
-           match branch_working r b with
-           | Some w => match assoc t (d_schema w) with
-                       | Some cols => ans_eqb a (ARows cols (rows_of t (d_data w)))
-                       | None => is_error a
-                       end
-           | None => is_error a
-           end
-         | _ => match a with ARows _ _ | AHist _ _ => want_commit r v t a | _ => true end   (* refusing is fine; rows must be the right ones *)
-         end
-*    if revdb_denotes r v then want_commit r v t a
-    else match (norm_base r (fst v), snd v) with
-         | (BBranch b, []) =>                         (* dirty branch: `db/branch` is the branch's working set *)
-           match branch_working r b with
-           | Some w => match assoc t (d_schema w) with
-                       | Some cols => ans_eqb a (ARows cols (rows_of t (d_data w)))
-                       | None => is_error a
-                       end
-           | None => is_error a
-           end
-         | _ => match a with ARows _ _ | AHist _ _ => want_commit r v t a | _ => true end   (* refusing is fine; rows must be the right ones *)
-         end
-     if revdb_denotes r v then want_commit r v t a
-    else match (norm_base r (fst v), snd v) with
-         | (BBranch b, []) =>                         (* dirty branch: `db/branch` is the branch's working set *)
-           match branch_working r b with
-           | Some w => match assoc t (d_schema w) with
-                       | Some cols => ans_eqb a (ARows cols (rows_of t (d_data w)))
-                       | None => is_error a
-                       end
-           | None => is_error a
-           end
-         | _ => match a with ARows _ _ | AHist _ _ => want_commit r v t a | _ => true end   (* refusing is fine; rows must be the right ones *)
-         end
--    if revdb_denotes r v then want_commit r v t a
-    else match (norm_base r (fst v), snd v) with
-         | (BBranch b, []) =>                         (* dirty branch: `db/branch` is the branch's working set *)
-           match branch_working r b with
-           | Some w => match assoc t (d_schema w) with
-                       | Some cols => ans_eqb a (ARows cols (rows_of t (d_data w)))
-                       | None => is_error a
-                       end
-           | None => is_error a
-           end
-         | _ => match a with ARows _ _ | AHist _ _ => want_commit r v t a | _ => true end   (* refusing is fine; rows must be the right ones *)
-         end
--    if revdb_denotes r v then want_commit r v t a
-    else match (norm_base r (fst v), snd v) with
-         | (BBranch b, []) =>                         (* dirty branch: `db/branch` is the branch's working set *)
-           match branch_working r b with
-           | Some w => match assoc t (d_schema w) with
-                       | Some cols => ans_eqb a (ARows cols (rows_of t (d_data w)))
-                       | None => is_error a
-                       end
-           | None => is_error a
-           end
-         | _ => match a with ARows _ _ | AHist _ _ => want_commit r v t a | _ => true end   (* refusing is fine; rows must be the right ones *)
-         end
--    if revdb_denotes r v then want_commit r v t a
-    else match (norm_base r (fst v), snd v) with
-         | (BBranch b, []) =>                         (* dirty branch: `db/branch` is the branch's working set *)
-           match branch_working r b with
-           | Some w => match assoc t (d_schema w) with
-                       | Some cols => ans_eqb a (ARows cols (rows_of t (d_data w)))
-                       | None => is_error a
-                       end
-           | None => is_error a
-           end
-         | _ => match a with ARows _ _ | AHist _ _ => want_commit r v t a | _ => true end   (* refusing is fine; rows must be the right ones *)
-         end
--    if revdb_denotes r v then want_commit r v t a
-    else match (norm_base r (fst v), snd v) with
-         | (BBranch b, []) =>                         (* dirty branch: `db/branch` is the branch's working set *)
-           match branch_working r b with
-           | Some w => match assoc t (d_schema w) with
-                       | Some cols => ans_eqb a (ARows cols (rows_of t (d_data w)))
-                       | None => is_error a
-                       end
-           | None => is_error a
-           end
-         | _ => match a with ARows _ _ | AHist _ _ => want_commit r v t a | _ => true end   (* refusing is fine; rows must be the right ones *)
-         end
-     if revdb_denotes r v then want_commit r v t a
-    else match (norm_base r (fst v), snd v) with
-         | (BBranch b, []) =>                         (* dirty branch: `db/branch` is the branch's working set *)
-           match branch_working r b with
-           | Some w => match assoc t (d_schema w) with
-                       | Some cols => ans_eqb a (ARows cols (rows_of t (d_data w)))
-                       | None => is_error a
-                       end
-           | None => is_error a
-           end
-         | _ => match a with ARows _ _ | AHist _ _ => want_commit r v t a | _ => true end   (* refusing is fine; rows must be the right ones *)
-         end
-t    if revdb_denotes r v then want_commit r v t a
-    else match (norm_base r (fst v), snd v) with
-         | (BBranch b, []) =>                         (* dirty branch: `db/branch` is the branch's working set *)
-           match branch_working r b with
-           | Some w => match assoc t (d_schema w) with
-                       | Some cols => ans_eqb a (ARows cols (rows_of t (d_data w)))
-                       | None => is_error a
-                       end
-           | None => is_error a
-           end
-         | _ => match a with ARows _ _ | AHist _ _ => want_commit r v t a | _ => true end   (* refusing is fine; rows must be the right ones *)
-         end
-h    if revdb_denotes r v then want_commit r v t a
-    else match (norm_base r (fst v), snd v) with
-         | (BBranch b, []) =>                         (* dirty branch: `db/branch` is the branch's working set *)
-           match branch_working r b with
-           | Some w => match assoc t (d_schema w) with
-                       | Some cols => ans_eqb a (ARows cols (rows_of t (d_data w)))
-                       | None => is_error a
-                       end
-           | None => is_error a
-           end
-         | _ => match a with ARows _ _ | AHist _ _ => want_commit r v t a | _ => true end   (* refusing is fine; rows must be the right ones *)
-         end
-e    if revdb_denotes r v then want_commit r v t a
-    else match (norm_base r (fst v), snd v) with
-         | (BBranch b, []) =>                         (* dirty branch: `db/branch` is the branch's working set *)
-           match branch_working r b with
-           | Some w => match assoc t (d_schema w) with
-                       | Some cols => ans_eqb a (ARows cols (rows_of t (d_data w)))
-                       | None => is_error a
-                       end
-           | None => is_error a
-           end
-         | _ => match a with ARows _ _ | AHist _ _ => want_commit r v t a | _ => true end   (* refusing is fine; rows must be the right ones *)
-         end
-     if revdb_denotes r v then want_commit r v t a
-    else match (norm_base r (fst v), snd v) with
-         | (BBranch b, []) =>                         (* dirty branch: `db/branch` is the branch's working set *)
-           match branch_working r b with
-           | Some w => match assoc t (d_schema w) with
-                       | Some cols => ans_eqb a (ARows cols (rows_of t (d_data w)))
-                       | None => is_error a
-                       end
-           | None => is_error a
-           end
-         | _ => match a with ARows _ _ | AHist _ _ => want_commit r v t a | _ => true end   (* refusing is fine; rows must be the right ones *)
-         end
-p    if revdb_denotes r v then want_commit r v t a
-    else match (norm_base r (fst v), snd v) with
-         | (BBranch b, []) =>                         (* dirty branch: `db/branch` is the branch's working set *)
-           match branch_working r b with
-           | Some w => match assoc t (d_schema w) with
-                       | Some cols => ans_eqb a (ARows cols (rows_of t (d_data w)))
-                       | None => is_error a
-                       end
-           | None => is_error a
-           end
-         | _ => match a with ARows _ _ | AHist _ _ => want_commit r v t a | _ => true end   (* refusing is fine; rows must be the right ones *)
-         end
-r    if revdb_denotes r v then want_commit r v t a
-    else match (norm_base r (fst v), snd v) with
-         | (BBranch b, []) =>                         (* dirty branch: `db/branch` is the branch's working set *)
-           match branch_working r b with
-           | Some w => match assoc t (d_schema w) with
-                       | Some cols => ans_eqb a (ARows cols (rows_of t (d_data w)))
-                       | None => is_error a
-                       end
-           | None => is_error a
-           end
-         | _ => match a with ARows _ _ | AHist _ _ => want_commit r v t a | _ => true end   (* refusing is fine; rows must be the right ones *)
-         end
-o    if revdb_denotes r v then want_commit r v t a
-    else match (norm_base r (fst v), snd v) with
-         | (BBranch b, []) =>                         (* dirty branch: `db/branch` is the branch's working set *)
-           match branch_working r b with
-           | Some w => match assoc t (d_schema w) with
-                       | Some cols => ans_eqb a (ARows cols (rows_of t (d_data w)))
-                       | None => is_error a
-                       end
-           | None => is_error a
-           end
-         | _ => match a with ARows _ _ | AHist _ _ => want_commit r v t a | _ => true end   (* refusing is fine; rows must be the right ones *)
-         end
-p    if revdb_denotes r v then want_commit r v t a
-    else match (norm_base r (fst v), snd v) with
-         | (BBranch b, []) =>                         (* dirty branch: `db/branch` is the branch's working set *)
-           match branch_working r b with
-           | Some w => match assoc t (d_schema w) with
-                       | Some cols => ans_eqb a (ARows cols (rows_of t (d_data w)))
-                       | None => is_error a
-                       end
-           | None => is_error a
-           end
-         | _ => match a with ARows _ _ | AHist _ _ => want_commit r v t a | _ => true end   (* refusing is fine; rows must be the right ones *)
-         end
-e    if revdb_denotes r v then want_commit r v t a
-    else match (norm_base r (fst v), snd v) with
-         | (BBranch b, []) =>                         (* dirty branch: `db/branch` is the branch's working set *)
-           match branch_working r b with
-           | Some w => match assoc t (d_schema w) with
-                       | Some cols => ans_eqb a (ARows cols (rows_of t (d_data w)))
-                       | None => is_error a
-                       end
-           | None => is_error a
-           end
-         | _ => match a with ARows _ _ | AHist _ _ => want_commit r v t a | _ => true end   (* refusing is fine; rows must be the right ones *)
-         end
-r    if revdb_denotes r v then want_commit r v t a
-    else match (norm_base r (fst v), snd v) with
-         | (BBranch b, []) =>                         (* dirty branch: `db/branch` is the branch's working set *)
-           match branch_working r b with
-           | Some w => match assoc t (d_schema w) with
-                       | Some cols => ans_eqb a (ARows cols (rows_of t (d_data w)))
-                       | None => is_error a
-                       end
-           | None => is_error a
-           end
-         | _ => match a with ARows _ _ | AHist _ _ => want_commit r v t a | _ => true end   (* refusing is fine; rows must be the right ones *)
-         end
-t    if revdb_denotes r v then want_commit r v t a
-    else match (norm_base r (fst v), snd v) with
-         | (BBranch b, []) =>                         (* dirty branch: `db/branch` is the branch's working set *)
-           match branch_working r b with
-           | Some w => match assoc t (d_schema w) with
-                       | Some cols => ans_eqb a (ARows cols (rows_of t (d_data w)))
-                       | None => is_error a
-                       end
-           | None => is_error a
-           end
-         | _ => match a with ARows _ _ | AHist _ _ => want_commit r v t a | _ => true end   (* refusing is fine; rows must be the right ones *)
-         end
-y    if revdb_denotes r v then want_commit r v t a
-    else match (norm_base r (fst v), snd v) with
-         | (BBranch b, []) =>                         (* dirty branch: `db/branch` is the branch's working set *)
-           match branch_working r b with
-           | Some w => match assoc t (d_schema w) with
-                       | Some cols => ans_eqb a (ARows cols (rows_of t (d_data w)))
-                       | None => is_error a
-                       end
-           | None => is_error a
-           end
-         | _ => match a with ARows _ _ | AHist _ _ => want_commit r v t a | _ => true end   (* refusing is fine; rows must be the right ones *)
-         end
-     if revdb_denotes r v then want_commit r v t a
-    else match (norm_base r (fst v), snd v) with
-         | (BBranch b, []) =>                         (* dirty branch: `db/branch` is the branch's working set *)
-           match branch_working r b with
-           | Some w => match assoc t (d_schema w) with
-                       | Some cols => ans_eqb a (ARows cols (rows_of t (d_data w)))
-                       | None => is_error a
-                       end
-           | None => is_error a
-           end
-         | _ => match a with ARows _ _ | AHist _ _ => want_commit r v t a | _ => true end   (* refusing is fine; rows must be the right ones *)
-         end
-o    if revdb_denotes r v then want_commit r v t a
-    else match (norm_base r (fst v), snd v) with
-         | (BBranch b, []) =>                         (* dirty branch: `db/branch` is the branch's working set *)
-           match branch_working r b with
-           | Some w => match assoc t (d_schema w) with
-                       | Some cols => ans_eqb a (ARows cols (rows_of t (d_data w)))
-                       | None => is_error a
-                       end
-           | None => is_error a
-           end
-         | _ => match a with ARows _ _ | AHist _ _ => want_commit r v t a | _ => true end   (* refusing is fine; rows must be the right ones *)
-         end
-n    if revdb_denotes r v then want_commit r v t a
-    else match (norm_base r (fst v), snd v) with
-         | (BBranch b, []) =>                         (* dirty branch: `db/branch` is the branch's working set *)
-           match branch_working r b with
-           | Some w => match assoc t (d_schema w) with
-                       | Some cols => ans_eqb a (ARows cols (rows_of t (d_data w)))
-                       | None => is_error a
-                       end
-           | None => is_error a
-           end
-         | _ => match a with ARows _ _ | AHist _ _ => want_commit r v t a | _ => true end   (* refusing is fine; rows must be the right ones *)
-         end
-     if revdb_denotes r v then want_commit r v t a
-    else match (norm_base r (fst v), snd v) with
-         | (BBranch b, []) =>                         (* dirty branch: `db/branch` is the branch's working set *)
-           match branch_working r b with
-           | Some w => match assoc t (d_schema w) with
-                       | Some cols => ans_eqb a (ARows cols (rows_of t (d_data w)))
-                       | None => is_error a
-                       end
-           | None => is_error a
-           end
-         | _ => match a with ARows _ _ | AHist _ _ => want_commit r v t a | _ => true end   (* refusing is fine; rows must be the right ones *)
-         end
-o    if revdb_denotes r v then want_commit r v t a
-    else match (norm_base r (fst v), snd v) with
-         | (BBranch b, []) =>                         (* dirty branch: `db/branch` is the branch's working set *)
-           match branch_working r b with
-           | Some w => match assoc t (d_schema w) with
-                       | Some cols => ans_eqb a (ARows cols (rows_of t (d_data w)))
-                       | None => is_error a
-                       end
-           | None => is_error a
-           end
-         | _ => match a with ARows _ _ | AHist _ _ => want_commit r v t a | _ => true end   (* refusing is fine; rows must be the right ones *)
-         end
-n    if revdb_denotes r v then want_commit r v t a
-    else match (norm_base r (fst v), snd v) with
-         | (BBranch b, []) =>                         (* dirty branch: `db/branch` is the branch's working set *)
-           match branch_working r b with
-           | Some w => match assoc t (d_schema w) with
-                       | Some cols => ans_eqb a (ARows cols (rows_of t (d_data w)))
-                       | None => is_error a
-                       end
-           | None => is_error a
-           end
-         | _ => match a with ARows _ _ | AHist _ _ => want_commit r v t a | _ => true end   (* refusing is fine; rows must be the right ones *)
-         end
-e    if revdb_denotes r v then want_commit r v t a
-    else match (norm_base r (fst v), snd v) with
-         | (BBranch b, []) =>                         (* dirty branch: `db/branch` is the branch's working set *)
-           match branch_working r b with
-           | Some w => match assoc t (d_schema w) with
-                       | Some cols => ans_eqb a (ARows cols (rows_of t (d_data w)))
-                       | None => is_error a
-                       end
-           | None => is_error a
-           end
-         | _ => match a with ARows _ _ | AHist _ _ => want_commit r v t a | _ => true end   (* refusing is fine; rows must be the right ones *)
-         end
-     if revdb_denotes r v then want_commit r v t a
-    else match (norm_base r (fst v), snd v) with
-         | (BBranch b, []) =>                         (* dirty branch: `db/branch` is the branch's working set *)
-           match branch_working r b with
-           | Some w => match assoc t (d_schema w) with
-                       | Some cols => ans_eqb a (ARows cols (rows_of t (d_data w)))
-                       | None => is_error a
-                       end
-           | None => is_error a
-           end
-         | _ => match a with ARows _ _ | AHist _ _ => want_commit r v t a | _ => true end   (* refusing is fine; rows must be the right ones *)
-         end
-a    if revdb_denotes r v then want_commit r v t a
-    else match (norm_base r (fst v), snd v) with
-         | (BBranch b, []) =>                         (* dirty branch: `db/branch` is the branch's working set *)
-           match branch_working r b with
-           | Some w => match assoc t (d_schema w) with
-                       | Some cols => ans_eqb a (ARows cols (rows_of t (d_data w)))
-                       | None => is_error a
-                       end
-           | None => is_error a
-           end
-         | _ => match a with ARows _ _ | AHist _ _ => want_commit r v t a | _ => true end   (* refusing is fine; rows must be the right ones *)
-         end
-n    if revdb_denotes r v then want_commit r v t a
-    else match (norm_base r (fst v), snd v) with
-         | (BBranch b, []) =>                         (* dirty branch: `db/branch` is the branch's working set *)
-           match branch_working r b with
-           | Some w => match assoc t (d_schema w) with
-                       | Some cols => ans_eqb a (ARows cols (rows_of t (d_data w)))
-                       | None => is_error a
-                       end
-           | None => is_error a
-           end
-         | _ => match a with ARows _ _ | AHist _ _ => want_commit r v t a | _ => true end   (* refusing is fine; rows must be the right ones *)
-         end
-s    if revdb_denotes r v then want_commit r v t a
-    else match (norm_base r (fst v), snd v) with
-         | (BBranch b, []) =>                         (* dirty branch: `db/branch` is the branch's working set *)
-           match branch_working r b with
-           | Some w => match assoc t (d_schema w) with
-                       | Some cols => ans_eqb a (ARows cols (rows_of t (d_data w)))
-                       | None => is_error a
-                       end
-           | None => is_error a
-           end
-         | _ => match a with ARows _ _ | AHist _ _ => want_commit r v t a | _ => true end   (* refusing is fine; rows must be the right ones *)
-         end
-w    if revdb_denotes r v then want_commit r v t a
-    else match (norm_base r (fst v), snd v) with
-         | (BBranch b, []) =>                         (* dirty branch: `db/branch` is the branch's working set *)
-           match branch_working r b with
-           | Some w => match assoc t (d_schema w) with
-                       | Some cols => ans_eqb a (ARows cols (rows_of t (d_data w)))
-                       | None => is_error a
-                       end
-           | None => is_error a
-           end
-         | _ => match a with ARows _ _ | AHist _ _ => want_commit r v t a | _ => true end   (* refusing is fine; rows must be the right ones *)
-         end
-e    if revdb_denotes r v then want_commit r v t a
-    else match (norm_base r (fst v), snd v) with
-         | (BBranch b, []) =>                         (* dirty branch: `db/branch` is the branch's working set *)
-           match branch_working r b with
-           | Some w => match assoc t (d_schema w) with
-                       | Some cols => ans_eqb a (ARows cols (rows_of t (d_data w)))
-                       | None => is_error a
-                       end
-           | None => is_error a
-           end
-         | _ => match a with ARows _ _ | AHist _ _ => want_commit r v t a | _ => true end   (* refusing is fine; rows must be the right ones *)
-         end
-r    if revdb_denotes r v then want_commit r v t a
-    else match (norm_base r (fst v), snd v) with
-         | (BBranch b, []) =>                         (* dirty branch: `db/branch` is the branch's working set *)
-           match branch_working r b with
-           | Some w => match assoc t (d_schema w) with
-                       | Some cols => ans_eqb a (ARows cols (rows_of t (d_data w)))
-                       | None => is_error a
-                       end
-           | None => is_error a
-           end
-         | _ => match a with ARows _ _ | AHist _ _ => want_commit r v t a | _ => true end   (* refusing is fine; rows must be the right ones *)
-         end
-     if revdb_denotes r v then want_commit r v t a
-    else match (norm_base r (fst v), snd v) with
-         | (BBranch b, []) =>                         (* dirty branch: `db/branch` is the branch's working set *)
-           match branch_working r b with
-           | Some w => match assoc t (d_schema w) with
-                       | Some cols => ans_eqb a (ARows cols (rows_of t (d_data w)))
-                       | None => is_error a
-                       end
-           | None => is_error a
-           end
-         | _ => match a with ARows _ _ | AHist _ _ => want_commit r v t a | _ => true end   (* refusing is fine; rows must be the right ones *)
-         end
--    if revdb_denotes r v then want_commit r v t a
-    else match (norm_base r (fst v), snd v) with
-         | (BBranch b, []) =>                         (* dirty branch: `db/branch` is the branch's working set *)
-           match branch_working r b with
-           | Some w => match assoc t (d_schema w) with
-                       | Some cols => ans_eqb a (ARows cols (rows_of t (d_data w)))
-                       | None => is_error a
-                       end
-           | None => is_error a
-           end
-         | _ => match a with ARows _ _ | AHist _ _ => want_commit r v t a | _ => true end   (* refusing is fine; rows must be the right ones *)
-         end
--    if revdb_denotes r v then want_commit r v t a
-    else match (norm_base r (fst v), snd v) with
-         | (BBranch b, []) =>                         (* dirty branch: `db/branch` is the branch's working set *)
-           match branch_working r b with
-           | Some w => match assoc t (d_schema w) with
-                       | Some cols => ans_eqb a (ARows cols (rows_of t (d_data w)))
-                       | None => is_error a
-                       end
-           | None => is_error a
-           end
-         | _ => match a with ARows _ _ | AHist _ _ => want_commit r v t a | _ => true end   (* refusing is fine; rows must be the right ones *)
-         end
--    if revdb_denotes r v then want_commit r v t a
-    else match (norm_base r (fst v), snd v) with
-         | (BBranch b, []) =>                         (* dirty branch: `db/branch` is the branch's working set *)
-           match branch_working r b with
-           | Some w => match assoc t (d_schema w) with
-                       | Some cols => ans_eqb a (ARows cols (rows_of t (d_data w)))
-                       | None => is_error a
-                       end
-           | None => is_error a
-           end
-         | _ => match a with ARows _ _ | AHist _ _ => want_commit r v t a | _ => true end   (* refusing is fine; rows must be the right ones *)
-         end
--    if revdb_denotes r v then want_commit r v t a
-    else match (norm_base r (fst v), snd v) with
-         | (BBranch b, []) =>                         (* dirty branch: `db/branch` is the branch's working set *)
-           match branch_working r b with
-           | Some w => match assoc t (d_schema w) with
-                       | Some cols => ans_eqb a (ARows cols (rows_of t (d_data w)))
-                       | None => is_error a
-                       end
-           | None => is_error a
-           end
-         | _ => match a with ARows _ _ | AHist _ _ => want_commit r v t a | _ => true end   (* refusing is fine; rows must be the right ones *)
-         end
-
-    if revdb_denotes r v then want_commit r v t a
-    else match (norm_base r (fst v), snd v) with
-         | (BBranch b, []) =>                         (* dirty branch: `db/branch` is the branch's working set *)
-           match branch_working r b with
-           | Some w => match assoc t (d_schema w) with
-                       | Some cols => ans_eqb a (ARows cols (rows_of t (d_data w)))
-                       | None => is_error a
-                       end
-           | None => is_error a
-           end
-         | _ => match a with ARows _ _ | AHist _ _ => want_commit r v t a | _ => true end   (* refusing is fine; rows must be the right ones *)
-         end
-     if revdb_denotes r v then want_commit r v t a
-    else match (norm_base r (fst v), snd v) with
-         | (BBranch b, []) =>                         (* dirty branch: `db/branch` is the branch's working set *)
-           match branch_working r b with
-           | Some w => match assoc t (d_schema w) with
-                       | Some cols => ans_eqb a (ARows cols (rows_of t (d_data w)))
-                       | None => is_error a
-                       end
-           | None => is_error a
-           end
-         | _ => match a with ARows _ _ | AHist _ _ => want_commit r v t a | _ => true end   (* refusing is fine; rows must be the right ones *)
-         end
-     if revdb_denotes r v then want_commit r v t a
-    else match (norm_base r (fst v), snd v) with
-         | (BBranch b, []) =>                         (* dirty branch: `db/branch` is the branch's working set *)
-           match branch_working r b with
-           | Some w => match assoc t (d_schema w) with
-                       | Some cols => ans_eqb a (ARows cols (rows_of t (d_data w)))
-                       | None => is_error a
-                       end
-           | None => is_error a
-           end
-         | _ => match a with ARows _ _ | AHist _ _ => want_commit r v t a | _ => true end   (* refusing is fine; rows must be the right ones *)
-         end
-     if revdb_denotes r v then want_commit r v t a
-    else match (norm_base r (fst v), snd v) with
-         | (BBranch b, []) =>                         (* dirty branch: `db/branch` is the branch's working set *)
-           match branch_working r b with
-           | Some w => match assoc t (d_schema w) with
-                       | Some cols => ans_eqb a (ARows cols (rows_of t (d_data w)))
-                       | None => is_error a
-                       end
-           | None => is_error a
-           end
-         | _ => match a with ARows _ _ | AHist _ _ => want_commit r v t a | _ => true end   (* refusing is fine; rows must be the right ones *)
-         end
-A    if revdb_denotes r v then want_commit r v t a
-    else match (norm_base r (fst v), snd v) with
-         | (BBranch b, []) =>                         (* dirty branch: `db/branch` is the branch's working set *)
-           match branch_working r b with
-           | Some w => match assoc t (d_schema w) with
-                       | Some cols => ans_eqb a (ARows cols (rows_of t (d_data w)))
-                       | None => is_error a
-                       end
-           | None => is_error a
-           end
-         | _ => match a with ARows _ _ | AHist _ _ => want_commit r v t a | _ => true end   (* refusing is fine; rows must be the right ones *)
-         end
-     if revdb_denotes r v then want_commit r v t a
-    else match (norm_base r (fst v), snd v) with
-         | (BBranch b, []) =>                         (* dirty branch: `db/branch` is the branch's working set *)
-           match branch_working r b with
-           | Some w => match assoc t (d_schema w) with
-                       | Some cols => ans_eqb a (ARows cols (rows_of t (d_data w)))
-                       | None => is_error a
-                       end
-           | None => is_error a
-           end
-         | _ => match a with ARows _ _ | AHist _ _ => want_commit r v t a | _ => true end   (* refusing is fine; rows must be the right ones *)
-         end
-r    if revdb_denotes r v then want_commit r v t a
-    else match (norm_base r (fst v), snd v) with
-         | (BBranch b, []) =>                         (* dirty branch: `db/branch` is the branch's working set *)
-           match branch_working r b with
-           | Some w => match assoc t (d_schema w) with
-                       | Some cols => ans_eqb a (ARows cols (rows_of t (d_data w)))
-                       | None => is_error a
-                       end
-           | None => is_error a
-           end
-         | _ => match a with ARows _ _ | AHist _ _ => want_commit r v t a | _ => true end   (* refusing is fine; rows must be the right ones *)
-         end
-e    if revdb_denotes r v then want_commit r v t a
-    else match (norm_base r (fst v), snd v) with
-         | (BBranch b, []) =>                         (* dirty branch: `db/branch` is the branch's working set *)
-           match branch_working r b with
-           | Some w => match assoc t (d_schema w) with
-                       | Some cols => ans_eqb a (ARows cols (rows_of t (d_data w)))
-                       | None => is_error a
-                       end
-           | None => is_error a
-           end
-         | _ => match a with ARows _ _ | AHist _ _ => want_commit r v t a | _ => true end   (* refusing is fine; rows must be the right ones *)
-         end
-a    if revdb_denotes r v then want_commit r v t a
-    else match (norm_base r (fst v), snd v) with
-         | (BBranch b, []) =>                         (* dirty branch: `db/branch` is the branch's working set *)
-           match branch_working r b with
-           | Some w => match assoc t (d_schema w) with
-                       | Some cols => ans_eqb a (ARows cols (rows_of t (d_data w)))
-                       | None => is_error a
-                       end
-           | None => is_error a
-           end
-         | _ => match a with ARows _ _ | AHist _ _ => want_commit r v t a | _ => true end   (* refusing is fine; rows must be the right ones *)
-         end
-d    if revdb_denotes r v then want_commit r v t a
-    else match (norm_base r (fst v), snd v) with
-         | (BBranch b, []) =>                         (* dirty branch: `db/branch` is the branch's working set *)
-           match branch_working r b with
-           | Some w => match assoc t (d_schema w) with
-                       | Some cols => ans_eqb a (ARows cols (rows_of t (d_data w)))
-                       | None => is_error a
-                       end
-           | None => is_error a
-           end
-         | _ => match a with ARows _ _ | AHist _ _ => want_commit r v t a | _ => true end   (* refusing is fine; rows must be the right ones *)
-         end
-     if revdb_denotes r v then want_commit r v t a
-    else match (norm_base r (fst v), snd v) with
-         | (BBranch b, []) =>                         (* dirty branch: `db/branch` is the branch's working set *)
-           match branch_working r b with
-           | Some w => match assoc t (d_schema w) with
-                       | Some cols => ans_eqb a (ARows cols (rows_of t (d_data w)))
-                       | None => is_error a
-                       end
-           | None => is_error a
-           end
-         | _ => match a with ARows _ _ | AHist _ _ => want_commit r v t a | _ => true end   (* refusing is fine; rows must be the right ones *)
-         end
-t    if revdb_denotes r v then want_commit r v t a
-    else match (norm_base r (fst v), snd v) with
-         | (BBranch b, []) =>                         (* dirty branch: `db/branch` is the branch's working set *)
-           match branch_working r b with
-           | Some w => match assoc t (d_schema w) with
-                       | Some cols => ans_eqb a (ARows cols (rows_of t (d_data w)))
-                       | None => is_error a
-                       end
-           | None => is_error a
-           end
-         | _ => match a with ARows _ _ | AHist _ _ => want_commit r v t a | _ => true end   (* refusing is fine; rows must be the right ones *)
-         end
-h    if revdb_denotes r v then want_commit r v t a
-    else match (norm_base r (fst v), snd v) with
-         | (BBranch b, []) =>                         (* dirty branch: `db/branch` is the branch's working set *)
-           match branch_working r b with
-           | Some w => match assoc t (d_schema w) with
-                       | Some cols => ans_eqb a (ARows cols (rows_of t (d_data w)))
-                       | None => is_error a
-                       end
-           | None => is_error a
-           end
-         | _ => match a with ARows _ _ | AHist _ _ => want_commit r v t a | _ => true end   (* refusing is fine; rows must be the right ones *)
-         end
-a    if revdb_denotes r v then want_commit r v t a
-    else match (norm_base r (fst v), snd v) with
-         | (BBranch b, []) =>                         (* dirty branch: `db/branch` is the branch's working set *)
-           match branch_working r b with
-           | Some w => match assoc t (d_schema w) with
-                       | Some cols => ans_eqb a (ARows cols (rows_of t (d_data w)))
-                       | None => is_error a
-                       end
-           | None => is_error a
-           end
-         | _ => match a with ARows _ _ | AHist _ _ => want_commit r v t a | _ => true end   (* refusing is fine; rows must be the right ones *)
-         end
-t    if revdb_denotes r v then want_commit r v t a
-    else match (norm_base r (fst v), snd v) with
-         | (BBranch b, []) =>                         (* dirty branch: `db/branch` is the branch's working set *)
-           match branch_working r b with
-           | Some w => match assoc t (d_schema w) with
-                       | Some cols => ans_eqb a (ARows cols (rows_of t (d_data w)))
-                       | None => is_error a
-                       end
-           | None => is_error a
-           end
-         | _ => match a with ARows _ _ | AHist _ _ => want_commit r v t a | _ => true end   (* refusing is fine; rows must be the right ones *)
-         end
-     if revdb_denotes r v then want_commit r v t a
-    else match (norm_base r (fst v), snd v) with
-         | (BBranch b, []) =>                         (* dirty branch: `db/branch` is the branch's working set *)
-           match branch_working r b with
-           | Some w => match assoc t (d_schema w) with
-                       | Some cols => ans_eqb a (ARows cols (rows_of t (d_data w)))
-                       | None => is_error a
-                       end
-           | None => is_error a
-           end
-         | _ => match a with ARows _ _ | AHist _ _ => want_commit r v t a | _ => true end   (* refusing is fine; rows must be the right ones *)
-         end
-n    if revdb_denotes r v then want_commit r v t a
-    else match (norm_base r (fst v), snd v) with
-         | (BBranch b, []) =>                         (* dirty branch: `db/branch` is the branch's working set *)
-           match branch_working r b with
-           | Some w => match assoc t (d_schema w) with
-                       | Some cols => ans_eqb a (ARows cols (rows_of t (d_data w)))
-                       | None => is_error a
-                       end
-           | None => is_error a
-           end
-         | _ => match a with ARows _ _ | AHist _ _ => want_commit r v t a | _ => true end   (* refusing is fine; rows must be the right ones *)
-         end
-a    if revdb_denotes r v then want_commit r v t a
-    else match (norm_base r (fst v), snd v) with
-         | (BBranch b, []) =>                         (* dirty branch: `db/branch` is the branch's working set *)
-           match branch_working r b with
-           | Some w => match assoc t (d_schema w) with
-                       | Some cols => ans_eqb a (ARows cols (rows_of t (d_data w)))
-                       | None => is_error a
-                       end
-           | None => is_error a
-           end
-         | _ => match a with ARows _ _ | AHist _ _ => want_commit r v t a | _ => true end   (* refusing is fine; rows must be the right ones *)
-         end
-m    if revdb_denotes r v then want_commit r v t a
-    else match (norm_base r (fst v), snd v) with
-         | (BBranch b, []) =>                         (* dirty branch: `db/branch` is the branch's working set *)
-           match branch_working r b with
-           | Some w => match assoc t (d_schema w) with
-                       | Some cols => ans_eqb a (ARows cols (rows_of t (d_data w)))
-                       | None => is_error a
-                       end
-           | None => is_error a
-           end
-         | _ => match a with ARows _ _ | AHist _ _ => want_commit r v t a | _ => true end   (* refusing is fine; rows must be the right ones *)
-         end
-e    if revdb_denotes r v then want_commit r v t a
-    else match (norm_base r (fst v), snd v) with
-         | (BBranch b, []) =>                         (* dirty branch: `db/branch` is the branch's working set *)
-           match branch_working r b with
-           | Some w => match assoc t (d_schema w) with
-                       | Some cols => ans_eqb a (ARows cols (rows_of t (d_data w)))
-                       | None => is_error a
-                       end
-           | None => is_error a
-           end
-         | _ => match a with ARows _ _ | AHist _ _ => want_commit r v t a | _ => true end   (* refusing is fine; rows must be the right ones *)
-         end
-s    if revdb_denotes r v then want_commit r v t a
-    else match (norm_base r (fst v), snd v) with
-         | (BBranch b, []) =>                         (* dirty branch: `db/branch` is the branch's working set *)
-           match branch_working r b with
-           | Some w => match assoc t (d_schema w) with
-                       | Some cols => ans_eqb a (ARows cols (rows_of t (d_data w)))
-                       | None => is_error a
-                       end
-           | None => is_error a
-           end
-         | _ => match a with ARows _ _ | AHist _ _ => want_commit r v t a | _ => true end   (* refusing is fine; rows must be the right ones *)
-         end
-     if revdb_denotes r v then want_commit r v t a
-    else match (norm_base r (fst v), snd v) with
-         | (BBranch b, []) =>                         (* dirty branch: `db/branch` is the branch's working set *)
-           match branch_working r b with
-           | Some w => match assoc t (d_schema w) with
-                       | Some cols => ans_eqb a (ARows cols (rows_of t (d_data w)))
-                       | None => is_error a
-                       end
-           | None => is_error a
-           end
-         | _ => match a with ARows _ _ | AHist _ _ => want_commit r v t a | _ => true end   (* refusing is fine; rows must be the right ones *)
-         end
-c    if revdb_denotes r v then want_commit r v t a
-    else match (norm_base r (fst v), snd v) with
-         | (BBranch b, []) =>                         (* dirty branch: `db/branch` is the branch's working set *)
-           match branch_working r b with
-           | Some w => match assoc t (d_schema w) with
-                       | Some cols => ans_eqb a (ARows cols (rows_of t (d_data w)))
-                       | None => is_error a
-                       end
-           | None => is_error a
-           end
-         | _ => match a with ARows _ _ | AHist _ _ => want_commit r v t a | _ => true end   (* refusing is fine; rows must be the right ones *)
-         end
-o    if revdb_denotes r v then want_commit r v t a
-    else match (norm_base r (fst v), snd v) with
-         | (BBranch b, []) =>                         (* dirty branch: `db/branch` is the branch's working set *)
-           match branch_working r b with
-           | Some w => match assoc t (d_schema w) with
-                       | Some cols => ans_eqb a (ARows cols (rows_of t (d_data w)))
-                       | None => is_error a
-                       end
-           | None => is_error a
-           end
-         | _ => match a with ARows _ _ | AHist _ _ => want_commit r v t a | _ => true end   (* refusing is fine; rows must be the right ones *)
-         end
-m    if revdb_denotes r v then want_commit r v t a
-    else match (norm_base r (fst v), snd v) with
-         | (BBranch b, []) =>                         (* dirty branch: `db/branch` is the branch's working set *)
-           match branch_working r b with
-           | Some w => match assoc t (d_schema w) with
-                       | Some cols => ans_eqb a (ARows cols (rows_of t (d_data w)))
-                       | None => is_error a
-                       end
-           | None => is_error a
-           end
-         | _ => match a with ARows _ _ | AHist _ _ => want_commit r v t a | _ => true end   (* refusing is fine; rows must be the right ones *)
-         end
-m    if revdb_denotes r v then want_commit r v t a
-    else match (norm_base r (fst v), snd v) with
-         | (BBranch b, []) =>                         (* dirty branch: `db/branch` is the branch's working set *)
-           match branch_working r b with
-           | Some w => match assoc t (d_schema w) with
-                       | Some cols => ans_eqb a (ARows cols (rows_of t (d_data w)))
-                       | None => is_error a
-                       end
-           | None => is_error a
-           end
-         | _ => match a with ARows _ _ | AHist _ _ => want_commit r v t a | _ => true end   (* refusing is fine; rows must be the right ones *)
-         end
-i    if revdb_denotes r v then want_commit r v t a
-    else match (norm_base r (fst v), snd v) with
-         | (BBranch b, []) =>                         (* dirty branch: `db/branch` is the branch's working set *)
-           match branch_working r b with
-           | Some w => match assoc t (d_schema w) with
-                       | Some cols => ans_eqb a (ARows cols (rows_of t (d_data w)))
-                       | None => is_error a
-                       end
-           | None => is_error a
-           end
-         | _ => match a with ARows _ _ | AHist _ _ => want_commit r v t a | _ => true end   (* refusing is fine; rows must be the right ones *)
-         end
-t    if revdb_denotes r v then want_commit r v t a
-    else match (norm_base r (fst v), snd v) with
-         | (BBranch b, []) =>                         (* dirty branch: `db/branch` is the branch's working set *)
-           match branch_working r b with
-           | Some w => match assoc t (d_schema w) with
-                       | Some cols => ans_eqb a (ARows cols (rows_of t (d_data w)))
-                       | None => is_error a
-                       end
-           | None => is_error a
-           end
-         | _ => match a with ARows _ _ | AHist _ _ => want_commit r v t a | _ => true end   (* refusing is fine; rows must be the right ones *)
-         end
-     if revdb_denotes r v then want_commit r v t a
-    else match (norm_base r (fst v), snd v) with
-         | (BBranch b, []) =>                         (* dirty branch: `db/branch` is the branch's working set *)
-           match branch_working r b with
-           | Some w => match assoc t (d_schema w) with
-                       | Some cols => ans_eqb a (ARows cols (rows_of t (d_data w)))
-                       | None => is_error a
-                       end
-           | None => is_error a
-           end
-         | _ => match a with ARows _ _ | AHist _ _ => want_commit r v t a | _ => true end   (* refusing is fine; rows must be the right ones *)
-         end
-c    if revdb_denotes r v then want_commit r v t a
-    else match (norm_base r (fst v), snd v) with
-         | (BBranch b, []) =>                         (* dirty branch: `db/branch` is the branch's working set *)
-           match branch_working r b with
-           | Some w => match assoc t (d_schema w) with
-                       | Some cols => ans_eqb a (ARows cols (rows_of t (d_data w)))
-                       | None => is_error a
-                       end
-           | None => is_error a
-           end
-         | _ => match a with ARows _ _ | AHist _ _ => want_commit r v t a | _ => true end   (* refusing is fine; rows must be the right ones *)
-         end
-     if revdb_denotes r v then want_commit r v t a
-    else match (norm_base r (fst v), snd v) with
-         | (BBranch b, []) =>                         (* dirty branch: `db/branch` is the branch's working set *)
-           match branch_working r b with
-           | Some w => match assoc t (d_schema w) with
-                       | Some cols => ans_eqb a (ARows cols (rows_of t (d_data w)))
-                       | None => is_error a
-                       end
-           | None => is_error a
-           end
-         | _ => match a with ARows _ _ | AHist _ _ => want_commit r v t a | _ => true end   (* refusing is fine; rows must be the right ones *)
-         end
-m    if revdb_denotes r v then want_commit r v t a
-    else match (norm_base r (fst v), snd v) with
-         | (BBranch b, []) =>                         (* dirty branch: `db/branch` is the branch's working set *)
-           match branch_working r b with
-           | Some w => match assoc t (d_schema w) with
-                       | Some cols => ans_eqb a (ARows cols (rows_of t (d_data w)))
-                       | None => is_error a
-                       end
-           | None => is_error a
-           end
-         | _ => match a with ARows _ _ | AHist _ _ => want_commit r v t a | _ => true end   (* refusing is fine; rows must be the right ones *)
-         end
-u    if revdb_denotes r v then want_commit r v t a
-    else match (norm_base r (fst v), snd v) with
-         | (BBranch b, []) =>                         (* dirty branch: `db/branch` is the branch's working set *)
-           match branch_working r b with
-           | Some w => match assoc t (d_schema w) with
-                       | Some cols => ans_eqb a (ARows cols (rows_of t (d_data w)))
-                       | None => is_error a
-                       end
-           | None => is_error a
-           end
-         | _ => match a with ARows _ _ | AHist _ _ => want_commit r v t a | _ => true end   (* refusing is fine; rows must be the right ones *)
-         end
-s    if revdb_denotes r v then want_commit r v t a
-    else match (norm_base r (fst v), snd v) with
-         | (BBranch b, []) =>                         (* dirty branch: `db/branch` is the branch's working set *)
-           match branch_working r b with
-           | Some w => match assoc t (d_schema w) with
-                       | Some cols => ans_eqb a (ARows cols (rows_of t (d_data w)))
-                       | None => is_error a
-                       end
-           | None => is_error a
-           end
-         | _ => match a with ARows _ _ | AHist _ _ => want_commit r v t a | _ => true end   (* refusing is fine; rows must be the right ones *)
-         end
-t    if revdb_denotes r v then want_commit r v t a
-    else match (norm_base r (fst v), snd v) with
-         | (BBranch b, []) =>                         (* dirty branch: `db/branch` is the branch's working set *)
-           match branch_working r b with
-           | Some w => match assoc t (d_schema w) with
-                       | Some cols => ans_eqb a (ARows cols (rows_of t (d_data w)))
-                       | None => is_error a
-                       end
-           | None => is_error a
-           end
-         | _ => match a with ARows _ _ | AHist _ _ => want_commit r v t a | _ => true end   (* refusing is fine; rows must be the right ones *)
-         end
-     if revdb_denotes r v then want_commit r v t a
-    else match (norm_base r (fst v), snd v) with
-         | (BBranch b, []) =>                         (* dirty branch: `db/branch` is the branch's working set *)
-           match branch_working r b with
-           | Some w => match assoc t (d_schema w) with
-                       | Some cols => ans_eqb a (ARows cols (rows_of t (d_data w)))
-                       | None => is_error a
-                       end
-           | None => is_error a
-           end
-         | _ => match a with ARows _ _ | AHist _ _ => want_commit r v t a | _ => true end   (* refusing is fine; rows must be the right ones *)
-         end
-r    if revdb_denotes r v then want_commit r v t a
-    else match (norm_base r (fst v), snd v) with
-         | (BBranch b, []) =>                         (* dirty branch: `db/branch` is the branch's working set *)
-           match branch_working r b with
-           | Some w => match assoc t (d_schema w) with
-                       | Some cols => ans_eqb a (ARows cols (rows_of t (d_data w)))
-                       | None => is_error a
-                       end
-           | None => is_error a
-           end
-         | _ => match a with ARows _ _ | AHist _ _ => want_commit r v t a | _ => true end   (* refusing is fine; rows must be the right ones *)
-         end
-e    if revdb_denotes r v then want_commit r v t a
-    else match (norm_base r (fst v), snd v) with
-         | (BBranch b, []) =>                         (* dirty branch: `db/branch` is the branch's working set *)
-           match branch_working r b with
-           | Some w => match assoc t (d_schema w) with
-                       | Some cols => ans_eqb a (ARows cols (rows_of t (d_data w)))
-                       | None => is_error a
-                       end
-           | None => is_error a
-           end
-         | _ => match a with ARows _ _ | AHist _ _ => want_commit r v t a | _ => true end   (* refusing is fine; rows must be the right ones *)
-         end
-t    if revdb_denotes r v then want_commit r v t a
-    else match (norm_base r (fst v), snd v) with
-         | (BBranch b, []) =>                         (* dirty branch: `db/branch` is the branch's working set *)
-           match branch_working r b with
-           | Some w => match assoc t (d_schema w) with
-                       | Some cols => ans_eqb a (ARows cols (rows_of t (d_data w)))
-                       | None => is_error a
-                       end
-           | None => is_error a
-           end
-         | _ => match a with ARows _ _ | AHist _ _ => want_commit r v t a | _ => true end   (* refusing is fine; rows must be the right ones *)
-         end
-u    if revdb_denotes r v then want_commit r v t a
-    else match (norm_base r (fst v), snd v) with
-         | (BBranch b, []) =>                         (* dirty branch: `db/branch` is the branch's working set *)
-           match branch_working r b with
-           | Some w => match assoc t (d_schema w) with
-                       | Some cols => ans_eqb a (ARows cols (rows_of t (d_data w)))
-                       | None => is_error a
-                       end
-           | None => is_error a
-           end
-         | _ => match a with ARows _ _ | AHist _ _ => want_commit r v t a | _ => true end   (* refusing is fine; rows must be the right ones *)
-         end
-r    if revdb_denotes r v then want_commit r v t a
-    else match (norm_base r (fst v), snd v) with
-         | (BBranch b, []) =>                         (* dirty branch: `db/branch` is the branch's working set *)
-           match branch_working r b with
-           | Some w => match assoc t (d_schema w) with
-                       | Some cols => ans_eqb a (ARows cols (rows_of t (d_data w)))
-                       | None => is_error a
-                       end
-           | None => is_error a
-           end
-         | _ => match a with ARows _ _ | AHist _ _ => want_commit r v t a | _ => true end   (* refusing is fine; rows must be the right ones *)
-         end
-n    if revdb_denotes r v then want_commit r v t a
-    else match (norm_base r (fst v), snd v) with
-         | (BBranch b, []) =>                         (* dirty branch: `db/branch` is the branch's working set *)
-           match branch_working r b with
-           | Some w => match assoc t (d_schema w) with
-                       | Some cols => ans_eqb a (ARows cols (rows_of t (d_data w)))
-                       | None => is_error a
-                       end
-           | None => is_error a
-           end
-         | _ => match a with ARows _ _ | AHist _ _ => want_commit r v t a | _ => true end   (* refusing is fine; rows must be the right ones *)
-         end
-     if revdb_denotes r v then want_commit r v t a
-    else match (norm_base r (fst v), snd v) with
-         | (BBranch b, []) =>                         (* dirty branch: `db/branch` is the branch's working set *)
-           match branch_working r b with
-           | Some w => match assoc t (d_schema w) with
-                       | Some cols => ans_eqb a (ARows cols (rows_of t (d_data w)))
-                       | None => is_error a
-                       end
-           | None => is_error a
-           end
-         | _ => match a with ARows _ _ | AHist _ _ => want_commit r v t a | _ => true end   (* refusing is fine; rows must be the right ones *)
-         end
-e    if revdb_denotes r v then want_commit r v t a
-    else match (norm_base r (fst v), snd v) with
-         | (BBranch b, []) =>                         (* dirty branch: `db/branch` is the branch's working set *)
-           match branch_working r b with
-           | Some w => match assoc t (d_schema w) with
-                       | Some cols => ans_eqb a (ARows cols (rows_of t (d_data w)))
-                       | None => is_error a
-                       end
-           | None => is_error a
-           end
-         | _ => match a with ARows _ _ | AHist _ _ => want_commit r v t a | _ => true end   (* refusing is fine; rows must be the right ones *)
-         end
-x    if revdb_denotes r v then want_commit r v t a
-    else match (norm_base r (fst v), snd v) with
-         | (BBranch b, []) =>                         (* dirty branch: `db/branch` is the branch's working set *)
-           match branch_working r b with
-           | Some w => match assoc t (d_schema w) with
-                       | Some cols => ans_eqb a (ARows cols (rows_of t (d_data w)))
-                       | None => is_error a
-                       end
-           | None => is_error a
-           end
-         | _ => match a with ARows _ _ | AHist _ _ => want_commit r v t a | _ => true end   (* refusing is fine; rows must be the right ones *)
-         end
-a    if revdb_denotes r v then want_commit r v t a
-    else match (norm_base r (fst v), snd v) with
-         | (BBranch b, []) =>                         (* dirty branch: `db/branch` is the branch's working set *)
-           match branch_working r b with
-           | Some w => match assoc t (d_schema w) with
-                       | Some cols => ans_eqb a (ARows cols (rows_of t (d_data w)))
-                       | None => is_error a
-                       end
-           | None => is_error a
-           end
-         | _ => match a with ARows _ _ | AHist _ _ => want_commit r v t a | _ => true end   (* refusing is fine; rows must be the right ones *)
-         end
-c    if revdb_denotes r v then want_commit r v t a
-    else match (norm_base r (fst v), snd v) with
-         | (BBranch b, []) =>                         (* dirty branch: `db/branch` is the branch's working set *)
-           match branch_working r b with
-           | Some w => match assoc t (d_schema w) with
-                       | Some cols => ans_eqb a (ARows cols (rows_of t (d_data w)))
-                       | None => is_error a
-                       end
-           | None => is_error a
-           end
-         | _ => match a with ARows _ _ | AHist _ _ => want_commit r v t a | _ => true end   (* refusing is fine; rows must be the right ones *)
-         end
-t    if revdb_denotes r v then want_commit r v t a
-    else match (norm_base r (fst v), snd v) with
-         | (BBranch b, []) =>                         (* dirty branch: `db/branch` is the branch's working set *)
-           match branch_working r b with
-           | Some w => match assoc t (d_schema w) with
-                       | Some cols => ans_eqb a (ARows cols (rows_of t (d_data w)))
-                       | None => is_error a
-                       end
-           | None => is_error a
-           end
-         | _ => match a with ARows _ _ | AHist _ _ => want_commit r v t a | _ => true end   (* refusing is fine; rows must be the right ones *)
-         end
-l    if revdb_denotes r v then want_commit r v t a
-    else match (norm_base r (fst v), snd v) with
-         | (BBranch b, []) =>                         (* dirty branch: `db/branch` is the branch's working set *)
-           match branch_working r b with
-           | Some w => match assoc t (d_schema w) with
-                       | Some cols => ans_eqb a (ARows cols (rows_of t (d_data w)))
-                       | None => is_error a
-                       end
-           | None => is_error a
-           end
-         | _ => match a with ARows _ _ | AHist _ _ => want_commit r v t a | _ => true end   (* refusing is fine; rows must be the right ones *)
-         end
-y    if revdb_denotes r v then want_commit r v t a
-    else match (norm_base r (fst v), snd v) with
-         | (BBranch b, []) =>                         (* dirty branch: `db/branch` is the branch's working set *)
-           match branch_working r b with
-           | Some w => match assoc t (d_schema w) with
-                       | Some cols => ans_eqb a (ARows cols (rows_of t (d_data w)))
-                       | None => is_error a
-                       end
-           | None => is_error a
-           end
-         | _ => match a with ARows _ _ | AHist _ _ => want_commit r v t a | _ => true end   (* refusing is fine; rows must be the right ones *)
-         end
-     if revdb_denotes r v then want_commit r v t a
-    else match (norm_base r (fst v), snd v) with
-         | (BBranch b, []) =>                         (* dirty branch: `db/branch` is the branch's working set *)
-           match branch_working r b with
-           | Some w => match assoc t (d_schema w) with
-                       | Some cols => ans_eqb a (ARows cols (rows_of t (d_data w)))
-                       | None => is_error a
-                       end
-           | None => is_error a
-           end
-         | _ => match a with ARows _ _ | AHist _ _ => want_commit r v t a | _ => true end   (* refusing is fine; rows must be the right ones *)
-         end
-t    if revdb_denotes r v then want_commit r v t a
-    else match (norm_base r (fst v), snd v) with
-         | (BBranch b, []) =>                         (* dirty branch: `db/branch` is the branch's working set *)
-           match branch_working r b with
-           | Some w => match assoc t (d_schema w) with
-                       | Some cols => ans_eqb a (ARows cols (rows_of t (d_data w)))
-                       | None => is_error a
-                       end
-           | None => is_error a
-           end
-         | _ => match a with ARows _ _ | AHist _ _ => want_commit r v t a | _ => true end   (* refusing is fine; rows must be the right ones *)
-         end
-a    if revdb_denotes r v then want_commit r v t a
-    else match (norm_base r (fst v), snd v) with
-         | (BBranch b, []) =>                         (* dirty branch: `db/branch` is the branch's working set *)
-           match branch_working r b with
-           | Some w => match assoc t (d_schema w) with
-                       | Some cols => ans_eqb a (ARows cols (rows_of t (d_data w)))
-                       | None => is_error a
-                       end
-           | None => is_error a
-           end
-         | _ => match a with ARows _ _ | AHist _ _ => want_commit r v t a | _ => true end   (* refusing is fine; rows must be the right ones *)
-         end
-b    if revdb_denotes r v then want_commit r v t a
-    else match (norm_base r (fst v), snd v) with
-         | (BBranch b, []) =>                         (* dirty branch: `db/branch` is the branch's working set *)
-           match branch_working r b with
-           | Some w => match assoc t (d_schema w) with
-                       | Some cols => ans_eqb a (ARows cols (rows_of t (d_data w)))
-                       | None => is_error a
-                       end
-           | None => is_error a
-           end
-         | _ => match a with ARows _ _ | AHist _ _ => want_commit r v t a | _ => true end   (* refusing is fine; rows must be the right ones *)
-         end
-l    if revdb_denotes r v then want_commit r v t a
-    else match (norm_base r (fst v), snd v) with
-         | (BBranch b, []) =>                         (* dirty branch: `db/branch` is the branch's working set *)
-           match branch_working r b with
-           | Some w => match assoc t (d_schema w) with
-                       | Some cols => ans_eqb a (ARows cols (rows_of t (d_data w)))
-                       | None => is_error a
-                       end
-           | None => is_error a
-           end
-         | _ => match a with ARows _ _ | AHist _ _ => want_commit r v t a | _ => true end   (* refusing is fine; rows must be the right ones *)
-         end
-e    if revdb_denotes r v then want_commit r v t a
-    else match (norm_base r (fst v), snd v) with
-         | (BBranch b, []) =>                         (* dirty branch: `db/branch` is the branch's working set *)
-           match branch_working r b with
-           | Some w => match assoc t (d_schema w) with
-                       | Some cols => ans_eqb a (ARows cols (rows_of t (d_data w)))
-                       | None => is_error a
-                       end
-           | None => is_error a
-           end
-         | _ => match a with ARows _ _ | AHist _ _ => want_commit r v t a | _ => true end   (* refusing is fine; rows must be the right ones *)
-         end
-     if revdb_denotes r v then want_commit r v t a
-    else match (norm_base r (fst v), snd v) with
-         | (BBranch b, []) =>                         (* dirty branch: `db/branch` is the branch's working set *)
-           match branch_working r b with
-           | Some w => match assoc t (d_schema w) with
-                       | Some cols => ans_eqb a (ARows cols (rows_of t (d_data w)))
-                       | None => is_error a
-                       end
-           | None => is_error a
-           end
-         | _ => match a with ARows _ _ | AHist _ _ => want_commit r v t a | _ => true end   (* refusing is fine; rows must be the right ones *)
-         end
-t    if revdb_denotes r v then want_commit r v t a
-    else match (norm_base r (fst v), snd v) with
-         | (BBranch b, []) =>                         (* dirty branch: `db/branch` is the branch's working set *)
-           match branch_working r b with
-           | Some w => match assoc t (d_schema w) with
-                       | Some cols => ans_eqb a (ARows cols (rows_of t (d_data w)))
-                       | None => is_error a
-                       end
-           | None => is_error a
-           end
-         | _ => match a with ARows _ _ | AHist _ _ => want_commit r v t a | _ => true end   (* refusing is fine; rows must be the right ones *)
-         end
-     if revdb_denotes r v then want_commit r v t a
-    else match (norm_base r (fst v), snd v) with
-         | (BBranch b, []) =>                         (* dirty branch: `db/branch` is the branch's working set *)
-           match branch_working r b with
-           | Some w => match assoc t (d_schema w) with
-                       | Some cols => ans_eqb a (ARows cols (rows_of t (d_data w)))
-                       | None => is_error a
-                       end
-           | None => is_error a
-           end
-         | _ => match a with ARows _ _ | AHist _ _ => want_commit r v t a | _ => true end   (* refusing is fine; rows must be the right ones *)
-         end
-o    if revdb_denotes r v then want_commit r v t a
-    else match (norm_base r (fst v), snd v) with
-         | (BBranch b, []) =>                         (* dirty branch: `db/branch` is the branch's working set *)
-           match branch_working r b with
-           | Some w => match assoc t (d_schema w) with
-                       | Some cols => ans_eqb a (ARows cols (rows_of t (d_data w)))
-                       | None => is_error a
-                       end
-           | None => is_error a
-           end
-         | _ => match a with ARows _ _ | AHist _ _ => want_commit r v t a | _ => true end   (* refusing is fine; rows must be the right ones *)
-         end
-f    if revdb_denotes r v then want_commit r v t a
-    else match (norm_base r (fst v), snd v) with
-         | (BBranch b, []) =>                         (* dirty branch: `db/branch` is the branch's working set *)
-           match branch_working r b with
-           | Some w => match assoc t (d_schema w) with
-                       | Some cols => ans_eqb a (ARows cols (rows_of t (d_data w)))
-                       | None => is_error a
-                       end
-           | None => is_error a
-           end
-         | _ => match a with ARows _ _ | AHist _ _ => want_commit r v t a | _ => true end   (* refusing is fine; rows must be the right ones *)
-         end
-     if revdb_denotes r v then want_commit r v t a
-    else match (norm_base r (fst v), snd v) with
-         | (BBranch b, []) =>                         (* dirty branch: `db/branch` is the branch's working set *)
-           match branch_working r b with
-           | Some w => match assoc t (d_schema w) with
-                       | Some cols => ans_eqb a (ARows cols (rows_of t (d_data w)))
-                       | None => is_error a
-                       end
-           | None => is_error a
-           end
-         | _ => match a with ARows _ _ | AHist _ _ => want_commit r v t a | _ => true end   (* refusing is fine; rows must be the right ones *)
-         end
-c    if revdb_denotes r v then want_commit r v t a
-    else match (norm_base r (fst v), snd v) with
-         | (BBranch b, []) =>                         (* dirty branch: `db/branch` is the branch's working set *)
-           match branch_working r b with
-           | Some w => match assoc t (d_schema w) with
-                       | Some cols => ans_eqb a (ARows cols (rows_of t (d_data w)))
-                       | None => is_error a
-                       end
-           | None => is_error a
-           end
-         | _ => match a with ARows _ _ | AHist _ _ => want_commit r v t a | _ => true end   (* refusing is fine; rows must be the right ones *)
-         end
-     if revdb_denotes r v then want_commit r v t a
-    else match (norm_base r (fst v), snd v) with
-         | (BBranch b, []) =>                         (* dirty branch: `db/branch` is the branch's working set *)
-           match branch_working r b with
-           | Some w => match assoc t (d_schema w) with
-                       | Some cols => ans_eqb a (ARows cols (rows_of t (d_data w)))
-                       | None => is_error a
-                       end
-           | None => is_error a
-           end
-         | _ => match a with ARows _ _ | AHist _ _ => want_commit r v t a | _ => true end   (* refusing is fine; rows must be the right ones *)
-         end
-(    if revdb_denotes r v then want_commit r v t a
-    else match (norm_base r (fst v), snd v) with
-         | (BBranch b, []) =>                         (* dirty branch: `db/branch` is the branch's working set *)
-           match branch_working r b with
-           | Some w => match assoc t (d_schema w) with
-                       | Some cols => ans_eqb a (ARows cols (rows_of t (d_data w)))
-                       | None => is_error a
-                       end
-           | None => is_error a
-           end
-         | _ => match a with ARows _ _ | AHist _ _ => want_commit r v t a | _ => true end   (* refusing is fine; rows must be the right ones *)
-         end
-c    if revdb_denotes r v then want_commit r v t a
-    else match (norm_base r (fst v), snd v) with
-         | (BBranch b, []) =>                         (* dirty branch: `db/branch` is the branch's working set *)
-           match branch_working r b with
-           | Some w => match assoc t (d_schema w) with
-                       | Some cols => ans_eqb a (ARows cols (rows_of t (d_data w)))
-                       | None => is_error a
-                       end
-           | None => is_error a
-           end
-         | _ => match a with ARows _ _ | AHist _ _ => want_commit r v t a | _ => true end   (* refusing is fine; rows must be the right ones *)
-         end
-o    if revdb_denotes r v then want_commit r v t a
-    else match (norm_base r (fst v), snd v) with
-         | (BBranch b, []) =>                         (* dirty branch: `db/branch` is the branch's working set *)
-           match branch_working r b with
-           | Some w => match assoc t (d_schema w) with
-                       | Some cols => ans_eqb a (ARows cols (rows_of t (d_data w)))
-                       | None => is_error a
-                       end
-           | None => is_error a
-           end
-         | _ => match a with ARows _ _ | AHist _ _ => want_commit r v t a | _ => true end   (* refusing is fine; rows must be the right ones *)
-         end
-l    if revdb_denotes r v then want_commit r v t a
-    else match (norm_base r (fst v), snd v) with
-         | (BBranch b, []) =>                         (* dirty branch: `db/branch` is the branch's working set *)
-           match branch_working r b with
-           | Some w => match assoc t (d_schema w) with
-                       | Some cols => ans_eqb a (ARows cols (rows_of t (d_data w)))
-                       | None => is_error a
-                       end
-           | None => is_error a
-           end
-         | _ => match a with ARows _ _ | AHist _ _ => want_commit r v t a | _ => true end   (* refusing is fine; rows must be the right ones *)
-         end
-u    if revdb_denotes r v then want_commit r v t a
-    else match (norm_base r (fst v), snd v) with
-         | (BBranch b, []) =>                         (* dirty branch: `db/branch` is the branch's working set *)
-           match branch_working r b with
-           | Some w => match assoc t (d_schema w) with
-                       | Some cols => ans_eqb a (ARows cols (rows_of t (d_data w)))
-                       | None => is_error a
-                       end
-           | None => is_error a
-           end
-         | _ => match a with ARows _ _ | AHist _ _ => want_commit r v t a | _ => true end   (* refusing is fine; rows must be the right ones *)
-         end
-m    if revdb_denotes r v then want_commit r v t a
-    else match (norm_base r (fst v), snd v) with
-         | (BBranch b, []) =>                         (* dirty branch: `db/branch` is the branch's working set *)
-           match branch_working r b with
-           | Some w => match assoc t (d_schema w) with
-                       | Some cols => ans_eqb a (ARows cols (rows_of t (d_data w)))
-                       | None => is_error a
-                       end
-           | None => is_error a
-           end
-         | _ => match a with ARows _ _ | AHist _ _ => want_commit r v t a | _ => true end   (* refusing is fine; rows must be the right ones *)
-         end
-n    if revdb_denotes r v then want_commit r v t a
-    else match (norm_base r (fst v), snd v) with
-         | (BBranch b, []) =>                         (* dirty branch: `db/branch` is the branch's working set *)
-           match branch_working r b with
-           | Some w => match assoc t (d_schema w) with
-                       | Some cols => ans_eqb a (ARows cols (rows_of t (d_data w)))
-                       | None => is_error a
-                       end
-           | None => is_error a
-           end
-         | _ => match a with ARows _ _ | AHist _ _ => want_commit r v t a | _ => true end   (* refusing is fine; rows must be the right ones *)
-         end
-s    if revdb_denotes r v then want_commit r v t a
-    else match (norm_base r (fst v), snd v) with
-         | (BBranch b, []) =>                         (* dirty branch: `db/branch` is the branch's working set *)
-           match branch_working r b with
-           | Some w => match assoc t (d_schema w) with
-                       | Some cols => ans_eqb a (ARows cols (rows_of t (d_data w)))
-                       | None => is_error a
-                       end
-           | None => is_error a
-           end
-         | _ => match a with ARows _ _ | AHist _ _ => want_commit r v t a | _ => true end   (* refusing is fine; rows must be the right ones *)
-         end
-     if revdb_denotes r v then want_commit r v t a
-    else match (norm_base r (fst v), snd v) with
-         | (BBranch b, []) =>                         (* dirty branch: `db/branch` is the branch's working set *)
-           match branch_working r b with
-           | Some w => match assoc t (d_schema w) with
-                       | Some cols => ans_eqb a (ARows cols (rows_of t (d_data w)))
-                       | None => is_error a
-                       end
-           | None => is_error a
-           end
-         | _ => match a with ARows _ _ | AHist _ _ => want_commit r v t a | _ => true end   (* refusing is fine; rows must be the right ones *)
-         end
-a    if revdb_denotes r v then want_commit r v t a
-    else match (norm_base r (fst v), snd v) with
-         | (BBranch b, []) =>                         (* dirty branch: `db/branch` is the branch's working set *)
-           match branch_working r b with
-           | Some w => match assoc t (d_schema w) with
-                       | Some cols => ans_eqb a (ARows cols (rows_of t (d_data w)))
-                       | None => is_error a
-                       end
-           | None => is_error a
-           end
-         | _ => match a with ARows _ _ | AHist _ _ => want_commit r v t a | _ => true end   (* refusing is fine; rows must be the right ones *)
-         end
-n    if revdb_denotes r v then want_commit r v t a
-    else match (norm_base r (fst v), snd v) with
-         | (BBranch b, []) =>                         (* dirty branch: `db/branch` is the branch's working set *)
-           match branch_working r b with
-           | Some w => match assoc t (d_schema w) with
-                       | Some cols => ans_eqb a (ARows cols (rows_of t (d_data w)))
-                       | None => is_error a
-                       end
-           | None => is_error a
-           end
-         | _ => match a with ARows _ _ | AHist _ _ => want_commit r v t a | _ => true end   (* refusing is fine; rows must be the right ones *)
-         end
-d    if revdb_denotes r v then want_commit r v t a
-    else match (norm_base r (fst v), snd v) with
-         | (BBranch b, []) =>                         (* dirty branch: `db/branch` is the branch's working set *)
-           match branch_working r b with
-           | Some w => match assoc t (d_schema w) with
-                       | Some cols => ans_eqb a (ARows cols (rows_of t (d_data w)))
-                       | None => is_error a
-                       end
-           | None => is_error a
-           end
-         | _ => match a with ARows _ _ | AHist _ _ => want_commit r v t a | _ => true end   (* refusing is fine; rows must be the right ones *)
-         end
-     if revdb_denotes r v then want_commit r v t a
-    else match (norm_base r (fst v), snd v) with
-         | (BBranch b, []) =>                         (* dirty branch: `db/branch` is the branch's working set *)
-           match branch_working r b with
-           | Some w => match assoc t (d_schema w) with
-                       | Some cols => ans_eqb a (ARows cols (rows_of t (d_data w)))
-                       | None => is_error a
-                       end
-           | None => is_error a
-           end
-         | _ => match a with ARows _ _ | AHist _ _ => want_commit r v t a | _ => true end   (* refusing is fine; rows must be the right ones *)
-         end
-r    if revdb_denotes r v then want_commit r v t a
-    else match (norm_base r (fst v), snd v) with
-         | (BBranch b, []) =>                         (* dirty branch: `db/branch` is the branch's working set *)
-           match branch_working r b with
-           | Some w => match assoc t (d_schema w) with
-                       | Some cols => ans_eqb a (ARows cols (rows_of t (d_data w)))
-                       | None => is_error a
-                       end
-           | None => is_error a
-           end
-         | _ => match a with ARows _ _ | AHist _ _ => want_commit r v t a | _ => true end   (* refusing is fine; rows must be the right ones *)
-         end
-o    if revdb_denotes r v then want_commit r v t a
-    else match (norm_base r (fst v), snd v) with
-         | (BBranch b, []) =>                         (* dirty branch: `db/branch` is the branch's working set *)
-           match branch_working r b with
-           | Some w => match assoc t (d_schema w) with
-                       | Some cols => ans_eqb a (ARows cols (rows_of t (d_data w)))
-                       | None => is_error a
-                       end
-           | None => is_error a
-           end
-         | _ => match a with ARows _ _ | AHist _ _ => want_commit r v t a | _ => true end   (* refusing is fine; rows must be the right ones *)
-         end
-w    if revdb_denotes r v then want_commit r v t a
-    else match (norm_base r (fst v), snd v) with
-         | (BBranch b, []) =>                         (* dirty branch: `db/branch` is the branch's working set *)
-           match branch_working r b with
-           | Some w => match assoc t (d_schema w) with
-                       | Some cols => ans_eqb a (ARows cols (rows_of t (d_data w)))
-                       | None => is_error a
-                       end
-           | None => is_error a
-           end
-         | _ => match a with ARows _ _ | AHist _ _ => want_commit r v t a | _ => true end   (* refusing is fine; rows must be the right ones *)
-         end
-s    if revdb_denotes r v then want_commit r v t a
-    else match (norm_base r (fst v), snd v) with
-         | (BBranch b, []) =>                         (* dirty branch: `db/branch` is the branch's working set *)
-           match branch_working r b with
-           | Some w => match assoc t (d_schema w) with
-                       | Some cols => ans_eqb a (ARows cols (rows_of t (d_data w)))
-                       | None => is_error a
-                       end
-           | None => is_error a
-           end
-         | _ => match a with ARows _ _ | AHist _ _ => want_commit r v t a | _ => true end   (* refusing is fine; rows must be the right ones *)
-         end
-)    if revdb_denotes r v then want_commit r v t a
-    else match (norm_base r (fst v), snd v) with
-         | (BBranch b, []) =>                         (* dirty branch: `db/branch` is the branch's working set *)
-           match branch_working r b with
-           | Some w => match assoc t (d_schema w) with
-                       | Some cols => ans_eqb a (ARows cols (rows_of t (d_data w)))
-                       | None => is_error a
-                       end
-           | None => is_error a
-           end
-         | _ => match a with ARows _ _ | AHist _ _ => want_commit r v t a | _ => true end   (* refusing is fine; rows must be the right ones *)
-         end
-
-    if revdb_denotes r v then want_commit r v t a
-    else match (norm_base r (fst v), snd v) with
-         | (BBranch b, []) =>                         (* dirty branch: `db/branch` is the branch's working set *)
-           match branch_working r b with
-           | Some w => match assoc t (d_schema w) with
-                       | Some cols => ans_eqb a (ARows cols (rows_of t (d_data w)))
-                       | None => is_error a
-                       end
-           | None => is_error a
-           end
-         | _ => match a with ARows _ _ | AHist _ _ => want_commit r v t a | _ => true end   (* refusing is fine; rows must be the right ones *)
-         end
-     if revdb_denotes r v then want_commit r v t a
-    else match (norm_base r (fst v), snd v) with
-         | (BBranch b, []) =>                         (* dirty branch: `db/branch` is the branch's working set *)
-           match branch_working r b with
-           | Some w => match assoc t (d_schema w) with
-                       | Some cols => ans_eqb a (ARows cols (rows_of t (d_data w)))
-                       | None => is_error a
-                       end
-           | None => is_error a
-           end
-         | _ => match a with ARows _ _ | AHist _ _ => want_commit r v t a | _ => true end   (* refusing is fine; rows must be the right ones *)
-         end
-     if revdb_denotes r v then want_commit r v t a
-    else match (norm_base r (fst v), snd v) with
-         | (BBranch b, []) =>                         (* dirty branch: `db/branch` is the branch's working set *)
-           match branch_working r b with
-           | Some w => match assoc t (d_schema w) with
-                       | Some cols => ans_eqb a (ARows cols (rows_of t (d_data w)))
-                       | None => is_error a
-                       end
-           | None => is_error a
-           end
-         | _ => match a with ARows _ _ | AHist _ _ => want_commit r v t a | _ => true end   (* refusing is fine; rows must be the right ones *)
-         end
-     if revdb_denotes r v then want_commit r v t a
-    else match (norm_base r (fst v), snd v) with
-         | (BBranch b, []) =>                         (* dirty branch: `db/branch` is the branch's working set *)
-           match branch_working r b with
-           | Some w => match assoc t (d_schema w) with
-                       | Some cols => ans_eqb a (ARows cols (rows_of t (d_data w)))
-                       | None => is_error a
-                       end
-           | None => is_error a
-           end
-         | _ => match a with ARows _ _ | AHist _ _ => want_commit r v t a | _ => true end   (* refusing is fine; rows must be the right ones *)
-         end
-o    if revdb_denotes r v then want_commit r v t a
-    else match (norm_base r (fst v), snd v) with
-         | (BBranch b, []) =>                         (* dirty branch: `db/branch` is the branch's working set *)
-           match branch_working r b with
-           | Some w => match assoc t (d_schema w) with
-                       | Some cols => ans_eqb a (ARows cols (rows_of t (d_data w)))
-                       | None => is_error a
-                       end
-           | None => is_error a
-           end
-         | _ => match a with ARows _ _ | AHist _ _ => want_commit r v t a | _ => true end   (* refusing is fine; rows must be the right ones *)
-         end
-r    if revdb_denotes r v then want_commit r v t a
-    else match (norm_base r (fst v), snd v) with
-         | (BBranch b, []) =>                         (* dirty branch: `db/branch` is the branch's working set *)
-           match branch_working r b with
-           | Some w => match assoc t (d_schema w) with
-                       | Some cols => ans_eqb a (ARows cols (rows_of t (d_data w)))
-                       | None => is_error a
-                       end
-           | None => is_error a
-           end
-         | _ => match a with ARows _ _ | AHist _ _ => want_commit r v t a | _ => true end   (* refusing is fine; rows must be the right ones *)
-         end
-     if revdb_denotes r v then want_commit r v t a
-    else match (norm_base r (fst v), snd v) with
-         | (BBranch b, []) =>                         (* dirty branch: `db/branch` is the branch's working set *)
-           match branch_working r b with
-           | Some w => match assoc t (d_schema w) with
-                       | Some cols => ans_eqb a (ARows cols (rows_of t (d_data w)))
-                       | None => is_error a
-                       end
-           | None => is_error a
-           end
-         | _ => match a with ARows _ _ | AHist _ _ => want_commit r v t a | _ => true end   (* refusing is fine; rows must be the right ones *)
-         end
-"    if revdb_denotes r v then want_commit r v t a
-    else match (norm_base r (fst v), snd v) with
-         | (BBranch b, []) =>                         (* dirty branch: `db/branch` is the branch's working set *)
-           match branch_working r b with
-           | Some w => match assoc t (d_schema w) with
-                       | Some cols => ans_eqb a (ARows cols (rows_of t (d_data w)))
-                       | None => is_error a
-                       end
-           | None => is_error a
-           end
-         | _ => match a with ARows _ _ | AHist _ _ => want_commit r v t a | _ => true end   (* refusing is fine; rows must be the right ones *)
-         end
-t    if revdb_denotes r v then want_commit r v t a
-    else match (norm_base r (fst v), snd v) with
-         | (BBranch b, []) =>                         (* dirty branch: `db/branch` is the branch's working set *)
-           match branch_working r b with
-           | Some w => match assoc t (d_schema w) with
-                       | Some cols => ans_eqb a (ARows cols (rows_of t (d_data w)))
-                       | None => is_error a
-                       end
-           | None => is_error a
-           end
-         | _ => match a with ARows _ _ | AHist _ _ => want_commit r v t a | _ => true end   (* refusing is fine; rows must be the right ones *)
-         end
-a    if revdb_denotes r v then want_commit r v t a
-    else match (norm_base r (fst v), snd v) with
-         | (BBranch b, []) =>                         (* dirty branch: `db/branch` is the branch's working set *)
-           match branch_working r b with
-           | Some w => match assoc t (d_schema w) with
-                       | Some cols => ans_eqb a (ARows cols (rows_of t (d_data w)))
-                       | None => is_error a
-                       end
-           | None => is_error a
-           end
-         | _ => match a with ARows _ _ | AHist _ _ => want_commit r v t a | _ => true end   (* refusing is fine; rows must be the right ones *)
-         end
-b    if revdb_denotes r v then want_commit r v t a
-    else match (norm_base r (fst v), snd v) with
-         | (BBranch b, []) =>                         (* dirty branch: `db/branch` is the branch's working set *)
-           match branch_working r b with
-           | Some w => match assoc t (d_schema w) with
-                       | Some cols => ans_eqb a (ARows cols (rows_of t (d_data w)))
-                       | None => is_error a
-                       end
-           | None => is_error a
-           end
-         | _ => match a with ARows _ _ | AHist _ _ => want_commit r v t a | _ => true end   (* refusing is fine; rows must be the right ones *)
-         end
-l    if revdb_denotes r v then want_commit r v t a
-    else match (norm_base r (fst v), snd v) with
-         | (BBranch b, []) =>                         (* dirty branch: `db/branch` is the branch's working set *)
-           match branch_working r b with
-           | Some w => match assoc t (d_schema w) with
-                       | Some cols => ans_eqb a (ARows cols (rows_of t (d_data w)))
-                       | None => is_error a
-                       end
-           | None => is_error a
-           end
-         | _ => match a with ARows _ _ | AHist _ _ => want_commit r v t a | _ => true end   (* refusing is fine; rows must be the right ones *)
-         end
-e    if revdb_denotes r v then want_commit r v t a
-    else match (norm_base r (fst v), snd v) with
-         | (BBranch b, []) =>                         (* dirty branch: `db/branch` is the branch's working set *)
-           match branch_working r b with
-           | Some w => match assoc t (d_schema w) with
-                       | Some cols => ans_eqb a (ARows cols (rows_of t (d_data w)))
-                       | None => is_error a
-                       end
-           | None => is_error a
-           end
-         | _ => match a with ARows _ _ | AHist _ _ => want_commit r v t a | _ => true end   (* refusing is fine; rows must be the right ones *)
-         end
-     if revdb_denotes r v then want_commit r v t a
-    else match (norm_base r (fst v), snd v) with
-         | (BBranch b, []) =>                         (* dirty branch: `db/branch` is the branch's working set *)
-           match branch_working r b with
-           | Some w => match assoc t (d_schema w) with
-                       | Some cols => ans_eqb a (ARows cols (rows_of t (d_data w)))
-                       | None => is_error a
-                       end
-           | None => is_error a
-           end
-         | _ => match a with ARows _ _ | AHist _ _ => want_commit r v t a | _ => true end   (* refusing is fine; rows must be the right ones *)
-         end
-n    if revdb_denotes r v then want_commit r v t a
-    else match (norm_base r (fst v), snd v) with
-         | (BBranch b, []) =>                         (* dirty branch: `db/branch` is the branch's working set *)
-           match branch_working r b with
-           | Some w => match assoc t (d_schema w) with
-                       | Some cols => ans_eqb a (ARows cols (rows_of t (d_data w)))
-                       | None => is_error a
-                       end
-           | None => is_error a
-           end
-         | _ => match a with ARows _ _ | AHist _ _ => want_commit r v t a | _ => true end   (* refusing is fine; rows must be the right ones *)
-         end
-o    if revdb_denotes r v then want_commit r v t a
-    else match (norm_base r (fst v), snd v) with
-         | (BBranch b, []) =>                         (* dirty branch: `db/branch` is the branch's working set *)
-           match branch_working r b with
-           | Some w => match assoc t (d_schema w) with
-                       | Some cols => ans_eqb a (ARows cols (rows_of t (d_data w)))
-                       | None => is_error a
-                       end
-           | None => is_error a
-           end
-         | _ => match a with ARows _ _ | AHist _ _ => want_commit r v t a | _ => true end   (* refusing is fine; rows must be the right ones *)
-         end
-t    if revdb_denotes r v then want_commit r v t a
-    else match (norm_base r (fst v), snd v) with
-         | (BBranch b, []) =>                         (* dirty branch: `db/branch` is the branch's working set *)
-           match branch_working r b with
-           | Some w => match assoc t (d_schema w) with
-                       | Some cols => ans_eqb a (ARows cols (rows_of t (d_data w)))
-                       | None => is_error a
-                       end
-           | None => is_error a
-           end
-         | _ => match a with ARows _ _ | AHist _ _ => want_commit r v t a | _ => true end   (* refusing is fine; rows must be the right ones *)
-         end
-     if revdb_denotes r v then want_commit r v t a
-    else match (norm_base r (fst v), snd v) with
-         | (BBranch b, []) =>                         (* dirty branch: `db/branch` is the branch's working set *)
-           match branch_working r b with
-           | Some w => match assoc t (d_schema w) with
-                       | Some cols => ans_eqb a (ARows cols (rows_of t (d_data w)))
-                       | None => is_error a
-                       end
-           | None => is_error a
-           end
-         | _ => match a with ARows _ _ | AHist _ _ => want_commit r v t a | _ => true end   (* refusing is fine; rows must be the right ones *)
-         end
-f    if revdb_denotes r v then want_commit r v t a
-    else match (norm_base r (fst v), snd v) with
-         | (BBranch b, []) =>                         (* dirty branch: `db/branch` is the branch's working set *)
-           match branch_working r b with
-           | Some w => match assoc t (d_schema w) with
-                       | Some cols => ans_eqb a (ARows cols (rows_of t (d_data w)))
-                       | None => is_error a
-                       end
-           | None => is_error a
-           end
-         | _ => match a with ARows _ _ | AHist _ _ => want_commit r v t a | _ => true end   (* refusing is fine; rows must be the right ones *)
-         end
-o    if revdb_denotes r v then want_commit r v t a
-    else match (norm_base r (fst v), snd v) with
-         | (BBranch b, []) =>                         (* dirty branch: `db/branch` is the branch's working set *)
-           match branch_working r b with
-           | Some w => match assoc t (d_schema w) with
-                       | Some cols => ans_eqb a (ARows cols (rows_of t (d_data w)))
-                       | None => is_error a
-                       end
-           | None => is_error a
-           end
-         | _ => match a with ARows _ _ | AHist _ _ => want_commit r v t a | _ => true end   (* refusing is fine; rows must be the right ones *)
-         end
-u    if revdb_denotes r v then want_commit r v t a
-    else match (norm_base r (fst v), snd v) with
-         | (BBranch b, []) =>                         (* dirty branch: `db/branch` is the branch's working set *)
-           match branch_working r b with
-           | Some w => match assoc t (d_schema w) with
-                       | Some cols => ans_eqb a (ARows cols (rows_of t (d_data w)))
-                       | None => is_error a
-                       end
-           | None => is_error a
-           end
-         | _ => match a with ARows _ _ | AHist _ _ => want_commit r v t a | _ => true end   (* refusing is fine; rows must be the right ones *)
-         end
-n    if revdb_denotes r v then want_commit r v t a
-    else match (norm_base r (fst v), snd v) with
-         | (BBranch b, []) =>                         (* dirty branch: `db/branch` is the branch's working set *)
-           match branch_working r b with
-           | Some w => match assoc t (d_schema w) with
-                       | Some cols => ans_eqb a (ARows cols (rows_of t (d_data w)))
-                       | None => is_error a
-                       end
-           | None => is_error a
-           end
-         | _ => match a with ARows _ _ | AHist _ _ => want_commit r v t a | _ => true end   (* refusing is fine; rows must be the right ones *)
-         end
-d    if revdb_denotes r v then want_commit r v t a
-    else match (norm_base r (fst v), snd v) with
-         | (BBranch b, []) =>                         (* dirty branch: `db/branch` is the branch's working set *)
-           match branch_working r b with
-           | Some w => match assoc t (d_schema w) with
-                       | Some cols => ans_eqb a (ARows cols (rows_of t (d_data w)))
-                       | None => is_error a
-                       end
-           | None => is_error a
-           end
-         | _ => match a with ARows _ _ | AHist _ _ => want_commit r v t a | _ => true end   (* refusing is fine; rows must be the right ones *)
-         end
-"    if revdb_denotes r v then want_commit r v t a
-    else match (norm_base r (fst v), snd v) with
-         | (BBranch b, []) =>                         (* dirty branch: `db/branch` is the branch's working set *)
-           match branch_working r b with
-           | Some w => match assoc t (d_schema w) with
-                       | Some cols => ans_eqb a (ARows cols (rows_of t (d_data w)))
-                       | None => is_error a
-                       end
-           | None => is_error a
-           end
-         | _ => match a with ARows _ _ | AHist _ _ => want_commit r v t a | _ => true end   (* refusing is fine; rows must be the right ones *)
-         end
-     if revdb_denotes r v then want_commit r v t a
-    else match (norm_base r (fst v), snd v) with
-         | (BBranch b, []) =>                         (* dirty branch: `db/branch` is the branch's working set *)
-           match branch_working r b with
-           | Some w => match assoc t (d_schema w) with
-                       | Some cols => ans_eqb a (ARows cols (rows_of t (d_data w)))
-                       | None => is_error a
-                       end
-           | None => is_error a
-           end
-         | _ => match a with ARows _ _ | AHist _ _ => want_commit r v t a | _ => true end   (* refusing is fine; rows must be the right ones *)
-         end
-w    if revdb_denotes r v then want_commit r v t a
-    else match (norm_base r (fst v), snd v) with
-         | (BBranch b, []) =>                         (* dirty branch: `db/branch` is the branch's working set *)
-           match branch_working r b with
-           | Some w => match assoc t (d_schema w) with
-                       | Some cols => ans_eqb a (ARows cols (rows_of t (d_data w)))
-                       | None => is_error a
-                       end
-           | None => is_error a
-           end
-         | _ => match a with ARows _ _ | AHist _ _ => want_commit r v t a | _ => true end   (* refusing is fine; rows must be the right ones *)
-         end
-h    if revdb_denotes r v then want_commit r v t a
-    else match (norm_base r (fst v), snd v) with
-         | (BBranch b, []) =>                         (* dirty branch: `db/branch` is the branch's working set *)
-           match branch_working r b with
-           | Some w => match assoc t (d_schema w) with
-                       | Some cols => ans_eqb a (ARows cols (rows_of t (d_data w)))
-                       | None => is_error a
-                       end
-           | None => is_error a
-           end
-         | _ => match a with ARows _ _ | AHist _ _ => want_commit r v t a | _ => true end   (* refusing is fine; rows must be the right ones *)
-         end
-e    if revdb_denotes r v then want_commit r v t a
-    else match (norm_base r (fst v), snd v) with
-         | (BBranch b, []) =>                         (* dirty branch: `db/branch` is the branch's working set *)
-           match branch_working r b with
-           | Some w => match assoc t (d_schema w) with
-                       | Some cols => ans_eqb a (ARows cols (rows_of t (d_data w)))
-                       | None => is_error a
-                       end
-           | None => is_error a
-           end
-         | _ => match a with ARows _ _ | AHist _ _ => want_commit r v t a | _ => true end   (* refusing is fine; rows must be the right ones *)
-         end
-n    if revdb_denotes r v then want_commit r v t a
-    else match (norm_base r (fst v), snd v) with
-         | (BBranch b, []) =>                         (* dirty branch: `db/branch` is the branch's working set *)
-           match branch_working r b with
-           | Some w => match assoc t (d_schema w) with
-                       | Some cols => ans_eqb a (ARows cols (rows_of t (d_data w)))
-                       | None => is_error a
-                       end
-           | None => is_error a
-           end
-         | _ => match a with ARows _ _ | AHist _ _ => want_commit r v t a | _ => true end   (* refusing is fine; rows must be the right ones *)
-         end
-     if revdb_denotes r v then want_commit r v t a
-    else match (norm_base r (fst v), snd v) with
-         | (BBranch b, []) =>                         (* dirty branch: `db/branch` is the branch's working set *)
-           match branch_working r b with
-           | Some w => match assoc t (d_schema w) with
-                       | Some cols => ans_eqb a (ARows cols (rows_of t (d_data w)))
-                       | None => is_error a
-                       end
-           | None => is_error a
-           end
-         | _ => match a with ARows _ _ | AHist _ _ => want_commit r v t a | _ => true end   (* refusing is fine; rows must be the right ones *)
-         end
-c    if revdb_denotes r v then want_commit r v t a
-    else match (norm_base r (fst v), snd v) with
-         | (BBranch b, []) =>                         (* dirty branch: `db/branch` is the branch's working set *)
-           match branch_working r b with
-           | Some w => match assoc t (d_schema w) with
-                       | Some cols => ans_eqb a (ARows cols (rows_of t (d_data w)))
-                       | None => is_error a
-                       end
-           | None => is_error a
-           end
-         | _ => match a with ARows _ _ | AHist _ _ => want_commit r v t a | _ => true end   (* refusing is fine; rows must be the right ones *)
-         end
-     if revdb_denotes r v then want_commit r v t a
-    else match (norm_base r (fst v), snd v) with
-         | (BBranch b, []) =>                         (* dirty branch: `db/branch` is the branch's working set *)
-           match branch_working r b with
-           | Some w => match assoc t (d_schema w) with
-                       | Some cols => ans_eqb a (ARows cols (rows_of t (d_data w)))
-                       | None => is_error a
-                       end
-           | None => is_error a
-           end
-         | _ => match a with ARows _ _ | AHist _ _ => want_commit r v t a | _ => true end   (* refusing is fine; rows must be the right ones *)
-         end
-h    if revdb_denotes r v then want_commit r v t a
-    else match (norm_base r (fst v), snd v) with
-         | (BBranch b, []) =>                         (* dirty branch: `db/branch` is the branch's working set *)
-           match branch_working r b with
-           | Some w => match assoc t (d_schema w) with
-                       | Some cols => ans_eqb a (ARows cols (rows_of t (d_data w)))
-                       | None => is_error a
-                       end
-           | None => is_error a
-           end
-         | _ => match a with ARows _ _ | AHist _ _ => want_commit r v t a | _ => true end   (* refusing is fine; rows must be the right ones *)
-         end
-a    if revdb_denotes r v then want_commit r v t a
-    else match (norm_base r (fst v), snd v) with
-         | (BBranch b, []) =>                         (* dirty branch: `db/branch` is the branch's working set *)
-           match branch_working r b with
-           | Some w => match assoc t (d_schema w) with
-                       | Some cols => ans_eqb a (ARows cols (rows_of t (d_data w)))
-                       | None => is_error a
-                       end
-           | None => is_error a
-           end
-         | _ => match a with ARows _ _ | AHist _ _ => want_commit r v t a | _ => true end   (* refusing is fine; rows must be the right ones *)
-         end
-s    if revdb_denotes r v then want_commit r v t a
-    else match (norm_base r (fst v), snd v) with
-         | (BBranch b, []) =>                         (* dirty branch: `db/branch` is the branch's working set *)
-           match branch_working r b with
-           | Some w => match assoc t (d_schema w) with
-                       | Some cols => ans_eqb a (ARows cols (rows_of t (d_data w)))
-                       | None => is_error a
-                       end
-           | None => is_error a
-           end
-         | _ => match a with ARows _ _ | AHist _ _ => want_commit r v t a | _ => true end   (* refusing is fine; rows must be the right ones *)
-         end
-     if revdb_denotes r v then want_commit r v t a
-    else match (norm_base r (fst v), snd v) with
-         | (BBranch b, []) =>                         (* dirty branch: `db/branch` is the branch's working set *)
-           match branch_working r b with
-           | Some w => match assoc t (d_schema w) with
-                       | Some cols => ans_eqb a (ARows cols (rows_of t (d_data w)))
-                       | None => is_error a
-                       end
-           | None => is_error a
-           end
-         | _ => match a with ARows _ _ | AHist _ _ => want_commit r v t a | _ => true end   (* refusing is fine; rows must be the right ones *)
-         end
-n    if revdb_denotes r v then want_commit r v t a
-    else match (norm_base r (fst v), snd v) with
-         | (BBranch b, []) =>                         (* dirty branch: `db/branch` is the branch's working set *)
-           match branch_working r b with
-           | Some w => match assoc t (d_schema w) with
-                       | Some cols => ans_eqb a (ARows cols (rows_of t (d_data w)))
-                       | None => is_error a
-                       end
-           | None => is_error a
-           end
-         | _ => match a with ARows _ _ | AHist _ _ => want_commit r v t a | _ => true end   (* refusing is fine; rows must be the right ones *)
-         end
-o    if revdb_denotes r v then want_commit r v t a
-    else match (norm_base r (fst v), snd v) with
-         | (BBranch b, []) =>                         (* dirty branch: `db/branch` is the branch's working set *)
-           match branch_working r b with
-           | Some w => match assoc t (d_schema w) with
-                       | Some cols => ans_eqb a (ARows cols (rows_of t (d_data w)))
-                       | None => is_error a
-                       end
-           | None => is_error a
-           end
-         | _ => match a with ARows _ _ | AHist _ _ => want_commit r v t a | _ => true end   (* refusing is fine; rows must be the right ones *)
-         end
-     if revdb_denotes r v then want_commit r v t a
-    else match (norm_base r (fst v), snd v) with
-         | (BBranch b, []) =>                         (* dirty branch: `db/branch` is the branch's working set *)
-           match branch_working r b with
-           | Some w => match assoc t (d_schema w) with
-                       | Some cols => ans_eqb a (ARows cols (rows_of t (d_data w)))
-                       | None => is_error a
-                       end
-           | None => is_error a
-           end
-         | _ => match a with ARows _ _ | AHist _ _ => want_commit r v t a | _ => true end   (* refusing is fine; rows must be the right ones *)
-         end
-s    if revdb_denotes r v then want_commit r v t a
-    else match (norm_base r (fst v), snd v) with
-         | (BBranch b, []) =>                         (* dirty branch: `db/branch` is the branch's working set *)
-           match branch_working r b with
-           | Some w => match assoc t (d_schema w) with
-                       | Some cols => ans_eqb a (ARows cols (rows_of t (d_data w)))
-                       | None => is_error a
-                       end
-           | None => is_error a
-           end
-         | _ => match a with ARows _ _ | AHist _ _ => want_commit r v t a | _ => true end   (* refusing is fine; rows must be the right ones *)
-         end
-u    if revdb_denotes r v then want_commit r v t a
-    else match (norm_base r (fst v), snd v) with
-         | (BBranch b, []) =>                         (* dirty branch: `db/branch` is the branch's working set *)
-           match branch_working r b with
-           | Some w => match assoc t (d_schema w) with
-                       | Some cols => ans_eqb a (ARows cols (rows_of t (d_data w)))
-                       | None => is_error a
-                       end
-           | None => is_error a
-           end
-         | _ => match a with ARows _ _ | AHist _ _ => want_commit r v t a | _ => true end   (* refusing is fine; rows must be the right ones *)
-         end
-c    if revdb_denotes r v then want_commit r v t a
-    else match (norm_base r (fst v), snd v) with
-         | (BBranch b, []) =>                         (* dirty branch: `db/branch` is the branch's working set *)
-           match branch_working r b with
-           | Some w => match assoc t (d_schema w) with
-                       | Some cols => ans_eqb a (ARows cols (rows_of t (d_data w)))
-                       | None => is_error a
-                       end
-           | None => is_error a
-           end
-         | _ => match a with ARows _ _ | AHist _ _ => want_commit r v t a | _ => true end   (* refusing is fine; rows must be the right ones *)
-         end
-h    if revdb_denotes r v then want_commit r v t a
-    else match (norm_base r (fst v), snd v) with
-         | (BBranch b, []) =>                         (* dirty branch: `db/branch` is the branch's working set *)
-           match branch_working r b with
-           | Some w => match assoc t (d_schema w) with
-                       | Some cols => ans_eqb a (ARows cols (rows_of t (d_data w)))
-                       | None => is_error a
-                       end
-           | None => is_error a
-           end
-         | _ => match a with ARows _ _ | AHist _ _ => want_commit r v t a | _ => true end   (* refusing is fine; rows must be the right ones *)
-         end
-     if revdb_denotes r v then want_commit r v t a
-    else match (norm_base r (fst v), snd v) with
-         | (BBranch b, []) =>                         (* dirty branch: `db/branch` is the branch's working set *)
-           match branch_working r b with
-           | Some w => match assoc t (d_schema w) with
-                       | Some cols => ans_eqb a (ARows cols (rows_of t (d_data w)))
-                       | None => is_error a
-                       end
-           | None => is_error a
-           end
-         | _ => match a with ARows _ _ | AHist _ _ => want_commit r v t a | _ => true end   (* refusing is fine; rows must be the right ones *)
-         end
-t    if revdb_denotes r v then want_commit r v t a
-    else match (norm_base r (fst v), snd v) with
-         | (BBranch b, []) =>                         (* dirty branch: `db/branch` is the branch's working set *)
-           match branch_working r b with
-           | Some w => match assoc t (d_schema w) with
-                       | Some cols => ans_eqb a (ARows cols (rows_of t (d_data w)))
-                       | None => is_error a
-                       end
-           | None => is_error a
-           end
-         | _ => match a with ARows _ _ | AHist _ _ => want_commit r v t a | _ => true end   (* refusing is fine; rows must be the right ones *)
-         end
-a    if revdb_denotes r v then want_commit r v t a
-    else match (norm_base r (fst v), snd v) with
-         | (BBranch b, []) =>                         (* dirty branch: `db/branch` is the branch's working set *)
-           match branch_working r b with
-           | Some w => match assoc t (d_schema w) with
-                       | Some cols => ans_eqb a (ARows cols (rows_of t (d_data w)))
-                       | None => is_error a
-                       end
-           | None => is_error a
-           end
-         | _ => match a with ARows _ _ | AHist _ _ => want_commit r v t a | _ => true end   (* refusing is fine; rows must be the right ones *)
-         end
-b    if revdb_denotes r v then want_commit r v t a
-    else match (norm_base r (fst v), snd v) with
-         | (BBranch b, []) =>                         (* dirty branch: `db/branch` is the branch's working set *)
-           match branch_working r b with
-           | Some w => match assoc t (d_schema w) with
-                       | Some cols => ans_eqb a (ARows cols (rows_of t (d_data w)))
-                       | None => is_error a
-                       end
-           | None => is_error a
-           end
-         | _ => match a with ARows _ _ | AHist _ _ => want_commit r v t a | _ => true end   (* refusing is fine; rows must be the right ones *)
-         end
-l    if revdb_denotes r v then want_commit r v t a
-    else match (norm_base r (fst v), snd v) with
-         | (BBranch b, []) =>                         (* dirty branch: `db/branch` is the branch's working set *)
-           match branch_working r b with
-           | Some w => match assoc t (d_schema w) with
-                       | Some cols => ans_eqb a (ARows cols (rows_of t (d_data w)))
-                       | None => is_error a
-                       end
-           | None => is_error a
-           end
-         | _ => match a with ARows _ _ | AHist _ _ => want_commit r v t a | _ => true end   (* refusing is fine; rows must be the right ones *)
-         end
-e    if revdb_denotes r v then want_commit r v t a
-    else match (norm_base r (fst v), snd v) with
-         | (BBranch b, []) =>                         (* dirty branch: `db/branch` is the branch's working set *)
-           match branch_working r b with
-           | Some w => match assoc t (d_schema w) with
-                       | Some cols => ans_eqb a (ARows cols (rows_of t (d_data w)))
-                       | None => is_error a
-                       end
-           | None => is_error a
-           end
-         | _ => match a with ARows _ _ | AHist _ _ => want_commit r v t a | _ => true end   (* refusing is fine; rows must be the right ones *)
-         end
-;    if revdb_denotes r v then want_commit r v t a
-    else match (norm_base r (fst v), snd v) with
-         | (BBranch b, []) =>                         (* dirty branch: `db/branch` is the branch's working set *)
-           match branch_working r b with
-           | Some w => match assoc t (d_schema w) with
-                       | Some cols => ans_eqb a (ARows cols (rows_of t (d_data w)))
-                       | None => is_error a
-                       end
-           | None => is_error a
-           end
-         | _ => match a with ARows _ _ | AHist _ _ => want_commit r v t a | _ => true end   (* refusing is fine; rows must be the right ones *)
-         end
-     if revdb_denotes r v then want_commit r v t a
-    else match (norm_base r (fst v), snd v) with
-         | (BBranch b, []) =>                         (* dirty branch: `db/branch` is the branch's working set *)
-           match branch_working r b with
-           | Some w => match assoc t (d_schema w) with
-                       | Some cols => ans_eqb a (ARows cols (rows_of t (d_data w)))
-                       | None => is_error a
-                       end
-           | None => is_error a
-           end
-         | _ => match a with ARows _ _ | AHist _ _ => want_commit r v t a | _ => true end   (* refusing is fine; rows must be the right ones *)
-         end
-a    if revdb_denotes r v then want_commit r v t a
-    else match (norm_base r (fst v), snd v) with
-         | (BBranch b, []) =>                         (* dirty branch: `db/branch` is the branch's working set *)
-           match branch_working r b with
-           | Some w => match assoc t (d_schema w) with
-                       | Some cols => ans_eqb a (ARows cols (rows_of t (d_data w)))
-                       | None => is_error a
-                       end
-           | None => is_error a
-           end
-         | _ => match a with ARows _ _ | AHist _ _ => want_commit r v t a | _ => true end   (* refusing is fine; rows must be the right ones *)
-         end
-     if revdb_denotes r v then want_commit r v t a
-    else match (norm_base r (fst v), snd v) with
-         | (BBranch b, []) =>                         (* dirty branch: `db/branch` is the branch's working set *)
-           match branch_working r b with
-           | Some w => match assoc t (d_schema w) with
-                       | Some cols => ans_eqb a (ARows cols (rows_of t (d_data w)))
-                       | None => is_error a
-                       end
-           | None => is_error a
-           end
-         | _ => match a with ARows _ _ | AHist _ _ => want_commit r v t a | _ => true end   (* refusing is fine; rows must be the right ones *)
-         end
-r    if revdb_denotes r v then want_commit r v t a
-    else match (norm_base r (fst v), snd v) with
-         | (BBranch b, []) =>                         (* dirty branch: `db/branch` is the branch's working set *)
-           match branch_working r b with
-           | Some w => match assoc t (d_schema w) with
-                       | Some cols => ans_eqb a (ARows cols (rows_of t (d_data w)))
-                       | None => is_error a
-                       end
-           | None => is_error a
-           end
-         | _ => match a with ARows _ _ | AHist _ _ => want_commit r v t a | _ => true end   (* refusing is fine; rows must be the right ones *)
-         end
-e    if revdb_denotes r v then want_commit r v t a
-    else match (norm_base r (fst v), snd v) with
-         | (BBranch b, []) =>                         (* dirty branch: `db/branch` is the branch's working set *)
-           match branch_working r b with
-           | Some w => match assoc t (d_schema w) with
-                       | Some cols => ans_eqb a (ARows cols (rows_of t (d_data w)))
-                       | None => is_error a
-                       end
-           | None => is_error a
-           end
-         | _ => match a with ARows _ _ | AHist _ _ => want_commit r v t a | _ => true end   (* refusing is fine; rows must be the right ones *)
-         end
-v    if revdb_denotes r v then want_commit r v t a
-    else match (norm_base r (fst v), snd v) with
-         | (BBranch b, []) =>                         (* dirty branch: `db/branch` is the branch's working set *)
-           match branch_working r b with
-           | Some w => match assoc t (d_schema w) with
-                       | Some cols => ans_eqb a (ARows cols (rows_of t (d_data w)))
-                       | None => is_error a
-                       end
-           | None => is_error a
-           end
-         | _ => match a with ARows _ _ | AHist _ _ => want_commit r v t a | _ => true end   (* refusing is fine; rows must be the right ones *)
-         end
-i    if revdb_denotes r v then want_commit r v t a
-    else match (norm_base r (fst v), snd v) with
-         | (BBranch b, []) =>                         (* dirty branch: `db/branch` is the branch's working set *)
-           match branch_working r b with
-           | Some w => match assoc t (d_schema w) with
-                       | Some cols => ans_eqb a (ARows cols (rows_of t (d_data w)))
-                       | None => is_error a
-                       end
-           | None => is_error a
-           end
-         | _ => match a with ARows _ _ | AHist _ _ => want_commit r v t a | _ => true end   (* refusing is fine; rows must be the right ones *)
-         end
-s    if revdb_denotes r v then want_commit r v t a
-    else match (norm_base r (fst v), snd v) with
-         | (BBranch b, []) =>                         (* dirty branch: `db/branch` is the branch's working set *)
-           match branch_working r b with
-           | Some w => match assoc t (d_schema w) with
-                       | Some cols => ans_eqb a (ARows cols (rows_of t (d_data w)))
-                       | None => is_error a
-                       end
-           | None => is_error a
-           end
-         | _ => match a with ARows _ _ | AHist _ _ => want_commit r v t a | _ => true end   (* refusing is fine; rows must be the right ones *)
-         end
-i    if revdb_denotes r v then want_commit r v t a
-    else match (norm_base r (fst v), snd v) with
-         | (BBranch b, []) =>                         (* dirty branch: `db/branch` is the branch's working set *)
-           match branch_working r b with
-           | Some w => match assoc t (d_schema w) with
-                       | Some cols => ans_eqb a (ARows cols (rows_of t (d_data w)))
-                       | None => is_error a
-                       end
-           | None => is_error a
-           end
-         | _ => match a with ARows _ _ | AHist _ _ => want_commit r v t a | _ => true end   (* refusing is fine; rows must be the right ones *)
-         end
-o    if revdb_denotes r v then want_commit r v t a
-    else match (norm_base r (fst v), snd v) with
-         | (BBranch b, []) =>                         (* dirty branch: `db/branch` is the branch's working set *)
-           match branch_working r b with
-           | Some w => match assoc t (d_schema w) with
-                       | Some cols => ans_eqb a (ARows cols (rows_of t (d_data w)))
-                       | None => is_error a
-                       end
-           | None => is_error a
-           end
-         | _ => match a with ARows _ _ | AHist _ _ => want_commit r v t a | _ => true end   (* refusing is fine; rows must be the right ones *)
-         end
-n    if revdb_denotes r v then want_commit r v t a
-    else match (norm_base r (fst v), snd v) with
-         | (BBranch b, []) =>                         (* dirty branch: `db/branch` is the branch's working set *)
-           match branch_working r b with
-           | Some w => match assoc t (d_schema w) with
-                       | Some cols => ans_eqb a (ARows cols (rows_of t (d_data w)))
-                       | None => is_error a
-                       end
-           | None => is_error a
-           end
-         | _ => match a with ARows _ _ | AHist _ _ => want_commit r v t a | _ => true end   (* refusing is fine; rows must be the right ones *)
-         end
-     if revdb_denotes r v then want_commit r v t a
-    else match (norm_base r (fst v), snd v) with
-         | (BBranch b, []) =>                         (* dirty branch: `db/branch` is the branch's working set *)
-           match branch_working r b with
-           | Some w => match assoc t (d_schema w) with
-                       | Some cols => ans_eqb a (ARows cols (rows_of t (d_data w)))
-                       | None => is_error a
-                       end
-           | None => is_error a
-           end
-         | _ => match a with ARows _ _ | AHist _ _ => want_commit r v t a | _ => true end   (* refusing is fine; rows must be the right ones *)
-         end
-t    if revdb_denotes r v then want_commit r v t a
-    else match (norm_base r (fst v), snd v) with
-         | (BBranch b, []) =>                         (* dirty branch: `db/branch` is the branch's working set *)
-           match branch_working r b with
-           | Some w => match assoc t (d_schema w) with
-                       | Some cols => ans_eqb a (ARows cols (rows_of t (d_data w)))
-                       | None => is_error a
-                       end
-           | None => is_error a
-           end
-         | _ => match a with ARows _ _ | AHist _ _ => want_commit r v t a | _ => true end   (* refusing is fine; rows must be the right ones *)
-         end
-h    if revdb_denotes r v then want_commit r v t a
-    else match (norm_base r (fst v), snd v) with
-         | (BBranch b, []) =>                         (* dirty branch: `db/branch` is the branch's working set *)
-           match branch_working r b with
-           | Some w => match assoc t (d_schema w) with
-                       | Some cols => ans_eqb a (ARows cols (rows_of t (d_data w)))
-                       | None => is_error a
-                       end
-           | None => is_error a
-           end
-         | _ => match a with ARows _ _ | AHist _ _ => want_commit r v t a | _ => true end   (* refusing is fine; rows must be the right ones *)
-         end
-a    if revdb_denotes r v then want_commit r v t a
-    else match (norm_base r (fst v), snd v) with
-         | (BBranch b, []) =>                         (* dirty branch: `db/branch` is the branch's working set *)
-           match branch_working r b with
-           | Some w => match assoc t (d_schema w) with
-                       | Some cols => ans_eqb a (ARows cols (rows_of t (d_data w)))
-                       | None => is_error a
-                       end
-           | None => is_error a
-           end
-         | _ => match a with ARows _ _ | AHist _ _ => want_commit r v t a | _ => true end   (* refusing is fine; rows must be the right ones *)
-         end
-t    if revdb_denotes r v then want_commit r v t a
-    else match (norm_base r (fst v), snd v) with
-         | (BBranch b, []) =>                         (* dirty branch: `db/branch` is the branch's working set *)
-           match branch_working r b with
-           | Some w => match assoc t (d_schema w) with
-                       | Some cols => ans_eqb a (ARows cols (rows_of t (d_data w)))
-                       | None => is_error a
-                       end
-           | None => is_error a
-           end
-         | _ => match a with ARows _ _ | AHist _ _ => want_commit r v t a | _ => true end   (* refusing is fine; rows must be the right ones *)
-         end
-     if revdb_denotes r v then want_commit r v t a
-    else match (norm_base r (fst v), snd v) with
-         | (BBranch b, []) =>                         (* dirty branch: `db/branch` is the branch's working set *)
-           match branch_working r b with
-           | Some w => match assoc t (d_schema w) with
-                       | Some cols => ans_eqb a (ARows cols (rows_of t (d_data w)))
-                       | None => is_error a
-                       end
-           | None => is_error a
-           end
-         | _ => match a with ARows _ _ | AHist _ _ => want_commit r v t a | _ => true end   (* refusing is fine; rows must be the right ones *)
-         end
-n    if revdb_denotes r v then want_commit r v t a
-    else match (norm_base r (fst v), snd v) with
-         | (BBranch b, []) =>                         (* dirty branch: `db/branch` is the branch's working set *)
-           match branch_working r b with
-           | Some w => match assoc t (d_schema w) with
-                       | Some cols => ans_eqb a (ARows cols (rows_of t (d_data w)))
-                       | None => is_error a
-                       end
-           | None => is_error a
-           end
-         | _ => match a with ARows _ _ | AHist _ _ => want_commit r v t a | _ => true end   (* refusing is fine; rows must be the right ones *)
-         end
-a    if revdb_denotes r v then want_commit r v t a
-    else match (norm_base r (fst v), snd v) with
-         | (BBranch b, []) =>                         (* dirty branch: `db/branch` is the branch's working set *)
-           match branch_working r b with
-           | Some w => match assoc t (d_schema w) with
-                       | Some cols => ans_eqb a (ARows cols (rows_of t (d_data w)))
-                       | None => is_error a
-                       end
-           | None => is_error a
-           end
-         | _ => match a with ARows _ _ | AHist _ _ => want_commit r v t a | _ => true end   (* refusing is fine; rows must be the right ones *)
-         end
-m    if revdb_denotes r v then want_commit r v t a
-    else match (norm_base r (fst v), snd v) with
-         | (BBranch b, []) =>                         (* dirty branch: `db/branch` is the branch's working set *)
-           match branch_working r b with
-           | Some w => match assoc t (d_schema w) with
-                       | Some cols => ans_eqb a (ARows cols (rows_of t (d_data w)))
-                       | None => is_error a
-                       end
-           | None => is_error a
-           end
-         | _ => match a with ARows _ _ | AHist _ _ => want_commit r v t a | _ => true end   (* refusing is fine; rows must be the right ones *)
-         end
-e    if revdb_denotes r v then want_commit r v t a
-    else match (norm_base r (fst v), snd v) with
-         | (BBranch b, []) =>                         (* dirty branch: `db/branch` is the branch's working set *)
-           match branch_working r b with
-           | Some w => match assoc t (d_schema w) with
-                       | Some cols => ans_eqb a (ARows cols (rows_of t (d_data w)))
-                       | None => is_error a
-                       end
-           | None => is_error a
-           end
-         | _ => match a with ARows _ _ | AHist _ _ => want_commit r v t a | _ => true end   (* refusing is fine; rows must be the right ones *)
-         end
-s    if revdb_denotes r v then want_commit r v t a
-    else match (norm_base r (fst v), snd v) with
-         | (BBranch b, []) =>                         (* dirty branch: `db/branch` is the branch's working set *)
-           match branch_working r b with
-           | Some w => match assoc t (d_schema w) with
-                       | Some cols => ans_eqb a (ARows cols (rows_of t (d_data w)))
-                       | None => is_error a
-                       end
-           | None => is_error a
-           end
-         | _ => match a with ARows _ _ | AHist _ _ => want_commit r v t a | _ => true end   (* refusing is fine; rows must be the right ones *)
-         end
-     if revdb_denotes r v then want_commit r v t a
-    else match (norm_base r (fst v), snd v) with
-         | (BBranch b, []) =>                         (* dirty branch: `db/branch` is the branch's working set *)
-           match branch_working r b with
-           | Some w => match assoc t (d_schema w) with
-                       | Some cols => ans_eqb a (ARows cols (rows_of t (d_data w)))
-                       | None => is_error a
-                       end
-           | None => is_error a
-           end
-         | _ => match a with ARows _ _ | AHist _ _ => want_commit r v t a | _ => true end   (* refusing is fine; rows must be the right ones *)
-         end
-n    if revdb_denotes r v then want_commit r v t a
-    else match (norm_base r (fst v), snd v) with
-         | (BBranch b, []) =>                         (* dirty branch: `db/branch` is the branch's working set *)
-           match branch_working r b with
-           | Some w => match assoc t (d_schema w) with
-                       | Some cols => ans_eqb a (ARows cols (rows_of t (d_data w)))
-                       | None => is_error a
-                       end
-           | None => is_error a
-           end
-         | _ => match a with ARows _ _ | AHist _ _ => want_commit r v t a | _ => true end   (* refusing is fine; rows must be the right ones *)
-         end
-o    if revdb_denotes r v then want_commit r v t a
-    else match (norm_base r (fst v), snd v) with
-         | (BBranch b, []) =>                         (* dirty branch: `db/branch` is the branch's working set *)
-           match branch_working r b with
-           | Some w => match assoc t (d_schema w) with
-                       | Some cols => ans_eqb a (ARows cols (rows_of t (d_data w)))
-                       | None => is_error a
-                       end
-           | None => is_error a
-           end
-         | _ => match a with ARows _ _ | AHist _ _ => want_commit r v t a | _ => true end   (* refusing is fine; rows must be the right ones *)
-         end
-     if revdb_denotes r v then want_commit r v t a
-    else match (norm_base r (fst v), snd v) with
-         | (BBranch b, []) =>                         (* dirty branch: `db/branch` is the branch's working set *)
-           match branch_working r b with
-           | Some w => match assoc t (d_schema w) with
-                       | Some cols => ans_eqb a (ARows cols (rows_of t (d_data w)))
-                       | None => is_error a
-                       end
-           | None => is_error a
-           end
-         | _ => match a with ARows _ _ | AHist _ _ => want_commit r v t a | _ => true end   (* refusing is fine; rows must be the right ones *)
-         end
-c    if revdb_denotes r v then want_commit r v t a
-    else match (norm_base r (fst v), snd v) with
-         | (BBranch b, []) =>                         (* dirty branch: `db/branch` is the branch's working set *)
-           match branch_working r b with
-           | Some w => match assoc t (d_schema w) with
-                       | Some cols => ans_eqb a (ARows cols (rows_of t (d_data w)))
-                       | None => is_error a
-                       end
-           | None => is_error a
-           end
-         | _ => match a with ARows _ _ | AHist _ _ => want_commit r v t a | _ => true end   (* refusing is fine; rows must be the right ones *)
-         end
-o    if revdb_denotes r v then want_commit r v t a
-    else match (norm_base r (fst v), snd v) with
-         | (BBranch b, []) =>                         (* dirty branch: `db/branch` is the branch's working set *)
-           match branch_working r b with
-           | Some w => match assoc t (d_schema w) with
-                       | Some cols => ans_eqb a (ARows cols (rows_of t (d_data w)))
-                       | None => is_error a
-                       end
-           | None => is_error a
-           end
-         | _ => match a with ARows _ _ | AHist _ _ => want_commit r v t a | _ => true end   (* refusing is fine; rows must be the right ones *)
-         end
-m    if revdb_denotes r v then want_commit r v t a
-    else match (norm_base r (fst v), snd v) with
-         | (BBranch b, []) =>                         (* dirty branch: `db/branch` is the branch's working set *)
-           match branch_working r b with
-           | Some w => match assoc t (d_schema w) with
-                       | Some cols => ans_eqb a (ARows cols (rows_of t (d_data w)))
-                       | None => is_error a
-                       end
-           | None => is_error a
-           end
-         | _ => match a with ARows _ _ | AHist _ _ => want_commit r v t a | _ => true end   (* refusing is fine; rows must be the right ones *)
-         end
-m    if revdb_denotes r v then want_commit r v t a
-    else match (norm_base r (fst v), snd v) with
-         | (BBranch b, []) =>                         (* dirty branch: `db/branch` is the branch's working set *)
-           match branch_working r b with
-           | Some w => match assoc t (d_schema w) with
-                       | Some cols => ans_eqb a (ARows cols (rows_of t (d_data w)))
-                       | None => is_error a
-                       end
-           | None => is_error a
-           end
-         | _ => match a with ARows _ _ | AHist _ _ => want_commit r v t a | _ => true end   (* refusing is fine; rows must be the right ones *)
-         end
-i    if revdb_denotes r v then want_commit r v t a
-    else match (norm_base r (fst v), snd v) with
-         | (BBranch b, []) =>                         (* dirty branch: `db/branch` is the branch's working set *)
-           match branch_working r b with
-           | Some w => match assoc t (d_schema w) with
-                       | Some cols => ans_eqb a (ARows cols (rows_of t (d_data w)))
-                       | None => is_error a
-                       end
-           | None => is_error a
-           end
-         | _ => match a with ARows _ _ | AHist _ _ => want_commit r v t a | _ => true end   (* refusing is fine; rows must be the right ones *)
-         end
-t    if revdb_denotes r v then want_commit r v t a
-    else match (norm_base r (fst v), snd v) with
-         | (BBranch b, []) =>                         (* dirty branch: `db/branch` is the branch's working set *)
-           match branch_working r b with
-           | Some w => match assoc t (d_schema w) with
-                       | Some cols => ans_eqb a (ARows cols (rows_of t (d_data w)))
-                       | None => is_error a
-                       end
-           | None => is_error a
-           end
-         | _ => match a with ARows _ _ | AHist _ _ => want_commit r v t a | _ => true end   (* refusing is fine; rows must be the right ones *)
-         end
-
-    if revdb_denotes r v then want_commit r v t a
-    else match (norm_base r (fst v), snd v) with
-         | (BBranch b, []) =>                         (* dirty branch: `db/branch` is the branch's working set *)
-           match branch_working r b with
-           | Some w => match assoc t (d_schema w) with
-                       | Some cols => ans_eqb a (ARows cols (rows_of t (d_data w)))
-                       | None => is_error a
-                       end
-           | None => is_error a
-           end
-         | _ => match a with ARows _ _ | AHist _ _ => want_commit r v t a | _ => true end   (* refusing is fine; rows must be the right ones *)
-         end
-     if revdb_denotes r v then want_commit r v t a
-    else match (norm_base r (fst v), snd v) with
-         | (BBranch b, []) =>                         (* dirty branch: `db/branch` is the branch's working set *)
-           match branch_working r b with
-           | Some w => match assoc t (d_schema w) with
-                       | Some cols => ans_eqb a (ARows cols (rows_of t (d_data w)))
-                       | None => is_error a
-                       end
-           | None => is_error a
-           end
-         | _ => match a with ARows _ _ | AHist _ _ => want_commit r v t a | _ => true end   (* refusing is fine; rows must be the right ones *)
-         end
-     if revdb_denotes r v then want_commit r v t a
-    else match (norm_base r (fst v), snd v) with
-         | (BBranch b, []) =>                         (* dirty branch: `db/branch` is the branch's working set *)
-           match branch_working r b with
-           | Some w => match assoc t (d_schema w) with
-                       | Some cols => ans_eqb a (ARows cols (rows_of t (d_data w)))
-                       | None => is_error a
-                       end
-           | None => is_error a
-           end
-         | _ => match a with ARows _ _ | AHist _ _ => want_commit r v t a | _ => true end   (* refusing is fine; rows must be the right ones *)
-         end
-     if revdb_denotes r v then want_commit r v t a
-    else match (norm_base r (fst v), snd v) with
-         | (BBranch b, []) =>                         (* dirty branch: `db/branch` is the branch's working set *)
-           match branch_working r b with
-           | Some w => match assoc t (d_schema w) with
-                       | Some cols => ans_eqb a (ARows cols (rows_of t (d_data w)))
-                       | None => is_error a
-                       end
-           | None => is_error a
-           end
-         | _ => match a with ARows _ _ | AHist _ _ => want_commit r v t a | _ => true end   (* refusing is fine; rows must be the right ones *)
-         end
-m    if revdb_denotes r v then want_commit r v t a
-    else match (norm_base r (fst v), snd v) with
-         | (BBranch b, []) =>                         (* dirty branch: `db/branch` is the branch's working set *)
-           match branch_working r b with
-           | Some w => match assoc t (d_schema w) with
-                       | Some cols => ans_eqb a (ARows cols (rows_of t (d_data w)))
-                       | None => is_error a
-                       end
-           | None => is_error a
-           end
-         | _ => match a with ARows _ _ | AHist _ _ => want_commit r v t a | _ => true end   (* refusing is fine; rows must be the right ones *)
-         end
-u    if revdb_denotes r v then want_commit r v t a
-    else match (norm_base r (fst v), snd v) with
-         | (BBranch b, []) =>                         (* dirty branch: `db/branch` is the branch's working set *)
-           match branch_working r b with
-           | Some w => match assoc t (d_schema w) with
-                       | Some cols => ans_eqb a (ARows cols (rows_of t (d_data w)))
-                       | None => is_error a
-                       end
-           | None => is_error a
-           end
-         | _ => match a with ARows _ _ | AHist _ _ => want_commit r v t a | _ => true end   (* refusing is fine; rows must be the right ones *)
-         end
-s    if revdb_denotes r v then want_commit r v t a
-    else match (norm_base r (fst v), snd v) with
-         | (BBranch b, []) =>                         (* dirty branch: `db/branch` is the branch's working set *)
-           match branch_working r b with
-           | Some w => match assoc t (d_schema w) with
-                       | Some cols => ans_eqb a (ARows cols (rows_of t (d_data w)))
-                       | None => is_error a
-                       end
-           | None => is_error a
-           end
-         | _ => match a with ARows _ _ | AHist _ _ => want_commit r v t a | _ => true end   (* refusing is fine; rows must be the right ones *)
-         end
-t    if revdb_denotes r v then want_commit r v t a
-    else match (norm_base r (fst v), snd v) with
-         | (BBranch b, []) =>                         (* dirty branch: `db/branch` is the branch's working set *)
-           match branch_working r b with
-           | Some w => match assoc t (d_schema w) with
-                       | Some cols => ans_eqb a (ARows cols (rows_of t (d_data w)))
-                       | None => is_error a
-                       end
-           | None => is_error a
-           end
-         | _ => match a with ARows _ _ | AHist _ _ => want_commit r v t a | _ => true end   (* refusing is fine; rows must be the right ones *)
-         end
-     if revdb_denotes r v then want_commit r v t a
-    else match (norm_base r (fst v), snd v) with
-         | (BBranch b, []) =>                         (* dirty branch: `db/branch` is the branch's working set *)
-           match branch_working r b with
-           | Some w => match assoc t (d_schema w) with
-                       | Some cols => ans_eqb a (ARows cols (rows_of t (d_data w)))
-                       | None => is_error a
-                       end
-           | None => is_error a
-           end
-         | _ => match a with ARows _ _ | AHist _ _ => want_commit r v t a | _ => true end   (* refusing is fine; rows must be the right ones *)
-         end
-n    if revdb_denotes r v then want_commit r v t a
-    else match (norm_base r (fst v), snd v) with
-         | (BBranch b, []) =>                         (* dirty branch: `db/branch` is the branch's working set *)
-           match branch_working r b with
-           | Some w => match assoc t (d_schema w) with
-                       | Some cols => ans_eqb a (ARows cols (rows_of t (d_data w)))
-                       | None => is_error a
-                       end
-           | None => is_error a
-           end
-         | _ => match a with ARows _ _ | AHist _ _ => want_commit r v t a | _ => true end   (* refusing is fine; rows must be the right ones *)
-         end
-o    if revdb_denotes r v then want_commit r v t a
-    else match (norm_base r (fst v), snd v) with
-         | (BBranch b, []) =>                         (* dirty branch: `db/branch` is the branch's working set *)
-           match branch_working r b with
-           | Some w => match assoc t (d_schema w) with
-                       | Some cols => ans_eqb a (ARows cols (rows_of t (d_data w)))
-                       | None => is_error a
-                       end
-           | None => is_error a
-           end
-         | _ => match a with ARows _ _ | AHist _ _ => want_commit r v t a | _ => true end   (* refusing is fine; rows must be the right ones *)
-         end
-t    if revdb_denotes r v then want_commit r v t a
-    else match (norm_base r (fst v), snd v) with
-         | (BBranch b, []) =>                         (* dirty branch: `db/branch` is the branch's working set *)
-           match branch_working r b with
-           | Some w => match assoc t (d_schema w) with
-                       | Some cols => ans_eqb a (ARows cols (rows_of t (d_data w)))
-                       | None => is_error a
-                       end
-           | None => is_error a
-           end
-         | _ => match a with ARows _ _ | AHist _ _ => want_commit r v t a | _ => true end   (* refusing is fine; rows must be the right ones *)
-         end
-     if revdb_denotes r v then want_commit r v t a
-    else match (norm_base r (fst v), snd v) with
-         | (BBranch b, []) =>                         (* dirty branch: `db/branch` is the branch's working set *)
-           match branch_working r b with
-           | Some w => match assoc t (d_schema w) with
-                       | Some cols => ans_eqb a (ARows cols (rows_of t (d_data w)))
-                       | None => is_error a
-                       end
-           | None => is_error a
-           end
-         | _ => match a with ARows _ _ | AHist _ _ => want_commit r v t a | _ => true end   (* refusing is fine; rows must be the right ones *)
-         end
-r    if revdb_denotes r v then want_commit r v t a
-    else match (norm_base r (fst v), snd v) with
-         | (BBranch b, []) =>                         (* dirty branch: `db/branch` is the branch's working set *)
-           match branch_working r b with
-           | Some w => match assoc t (d_schema w) with
-                       | Some cols => ans_eqb a (ARows cols (rows_of t (d_data w)))
-                       | None => is_error a
-                       end
-           | None => is_error a
-           end
-         | _ => match a with ARows _ _ | AHist _ _ => want_commit r v t a | _ => true end   (* refusing is fine; rows must be the right ones *)
-         end
-e    if revdb_denotes r v then want_commit r v t a
-    else match (norm_base r (fst v), snd v) with
-         | (BBranch b, []) =>                         (* dirty branch: `db/branch` is the branch's working set *)
-           match branch_working r b with
-           | Some w => match assoc t (d_schema w) with
-                       | Some cols => ans_eqb a (ARows cols (rows_of t (d_data w)))
-                       | None => is_error a
-                       end
-           | None => is_error a
-           end
-         | _ => match a with ARows _ _ | AHist _ _ => want_commit r v t a | _ => true end   (* refusing is fine; rows must be the right ones *)
-         end
-t    if revdb_denotes r v then want_commit r v t a
-    else match (norm_base r (fst v), snd v) with
-         | (BBranch b, []) =>                         (* dirty branch: `db/branch` is the branch's working set *)
-           match branch_working r b with
-           | Some w => match assoc t (d_schema w) with
-                       | Some cols => ans_eqb a (ARows cols (rows_of t (d_data w)))
-                       | None => is_error a
-                       end
-           | None => is_error a
-           end
-         | _ => match a with ARows _ _ | AHist _ _ => want_commit r v t a | _ => true end   (* refusing is fine; rows must be the right ones *)
-         end
-u    if revdb_denotes r v then want_commit r v t a
-    else match (norm_base r (fst v), snd v) with
-         | (BBranch b, []) =>                         (* dirty branch: `db/branch` is the branch's working set *)
-           match branch_working r b with
-           | Some w => match assoc t (d_schema w) with
-                       | Some cols => ans_eqb a (ARows cols (rows_of t (d_data w)))
-                       | None => is_error a
-                       end
-           | None => is_error a
-           end
-         | _ => match a with ARows _ _ | AHist _ _ => want_commit r v t a | _ => true end   (* refusing is fine; rows must be the right ones *)
-         end
-r    if revdb_denotes r v then want_commit r v t a
-    else match (norm_base r (fst v), snd v) with
-         | (BBranch b, []) =>                         (* dirty branch: `db/branch` is the branch's working set *)
-           match branch_working r b with
-           | Some w => match assoc t (d_schema w) with
-                       | Some cols => ans_eqb a (ARows cols (rows_of t (d_data w)))
-                       | None => is_error a
-                       end
-           | None => is_error a
-           end
-         | _ => match a with ARows _ _ | AHist _ _ => want_commit r v t a | _ => true end   (* refusing is fine; rows must be the right ones *)
-         end
-n    if revdb_denotes r v then want_commit r v t a
-    else match (norm_base r (fst v), snd v) with
-         | (BBranch b, []) =>                         (* dirty branch: `db/branch` is the branch's working set *)
-           match branch_working r b with
-           | Some w => match assoc t (d_schema w) with
-                       | Some cols => ans_eqb a (ARows cols (rows_of t (d_data w)))
-                       | None => is_error a
-                       end
-           | None => is_error a
-           end
-         | _ => match a with ARows _ _ | AHist _ _ => want_commit r v t a | _ => true end   (* refusing is fine; rows must be the right ones *)
-         end
-     if revdb_denotes r v then want_commit r v t a
-    else match (norm_base r (fst v), snd v) with
-         | (BBranch b, []) =>                         (* dirty branch: `db/branch` is the branch's working set *)
-           match branch_working r b with
-           | Some w => match assoc t (d_schema w) with
-                       | Some cols => ans_eqb a (ARows cols (rows_of t (d_data w)))
-                       | None => is_error a
-                       end
-           | None => is_error a
-           end
-         | _ => match a with ARows _ _ | AHist _ _ => want_commit r v t a | _ => true end   (* refusing is fine; rows must be the right ones *)
-         end
-r    if revdb_denotes r v then want_commit r v t a
-    else match (norm_base r (fst v), snd v) with
-         | (BBranch b, []) =>                         (* dirty branch: `db/branch` is the branch's working set *)
-           match branch_working r b with
-           | Some w => match assoc t (d_schema w) with
-                       | Some cols => ans_eqb a (ARows cols (rows_of t (d_data w)))
-                       | None => is_error a
-                       end
-           | None => is_error a
-           end
-         | _ => match a with ARows _ _ | AHist _ _ => want_commit r v t a | _ => true end   (* refusing is fine; rows must be the right ones *)
-         end
-o    if revdb_denotes r v then want_commit r v t a
-    else match (norm_base r (fst v), snd v) with
-         | (BBranch b, []) =>                         (* dirty branch: `db/branch` is the branch's working set *)
-           match branch_working r b with
-           | Some w => match assoc t (d_schema w) with
-                       | Some cols => ans_eqb a (ARows cols (rows_of t (d_data w)))
-                       | None => is_error a
-                       end
-           | None => is_error a
-           end
-         | _ => match a with ARows _ _ | AHist _ _ => want_commit r v t a | _ => true end   (* refusing is fine; rows must be the right ones *)
-         end
-w    if revdb_denotes r v then want_commit r v t a
-    else match (norm_base r (fst v), snd v) with
-         | (BBranch b, []) =>                         (* dirty branch: `db/branch` is the branch's working set *)
-           match branch_working r b with
-           | Some w => match assoc t (d_schema w) with
-                       | Some cols => ans_eqb a (ARows cols (rows_of t (d_data w)))
-                       | None => is_error a
-                       end
-           | None => is_error a
-           end
-         | _ => match a with ARows _ _ | AHist _ _ => want_commit r v t a | _ => true end   (* refusing is fine; rows must be the right ones *)
-         end
-s    if revdb_denotes r v then want_commit r v t a
-    else match (norm_base r (fst v), snd v) with
-         | (BBranch b, []) =>                         (* dirty branch: `db/branch` is the branch's working set *)
-           match branch_working r b with
-           | Some w => match assoc t (d_schema w) with
-                       | Some cols => ans_eqb a (ARows cols (rows_of t (d_data w)))
-                       | None => is_error a
-                       end
-           | None => is_error a
-           end
-         | _ => match a with ARows _ _ | AHist _ _ => want_commit r v t a | _ => true end   (* refusing is fine; rows must be the right ones *)
-         end
-.    if revdb_denotes r v then want_commit r v t a
-    else match (norm_base r (fst v), snd v) with
-         | (BBranch b, []) =>                         (* dirty branch: `db/branch` is the branch's working set *)
-           match branch_working r b with
-           | Some w => match assoc t (d_schema w) with
-                       | Some cols => ans_eqb a (ARows cols (rows_of t (d_data w)))
-                       | None => is_error a
-                       end
-           | None => is_error a
-           end
-         | _ => match a with ARows _ _ | AHist _ _ => want_commit r v t a | _ => true end   (* refusing is fine; rows must be the right ones *)
-         end
-     if revdb_denotes r v then want_commit r v t a
-    else match (norm_base r (fst v), snd v) with
-         | (BBranch b, []) =>                         (* dirty branch: `db/branch` is the branch's working set *)
-           match branch_working r b with
-           | Some w => match assoc t (d_schema w) with
-                       | Some cols => ans_eqb a (ARows cols (rows_of t (d_data w)))
-                       | None => is_error a
-                       end
-           | None => is_error a
-           end
-         | _ => match a with ARows _ _ | AHist _ _ => want_commit r v t a | _ => true end   (* refusing is fine; rows must be the right ones *)
-         end
-     if revdb_denotes r v then want_commit r v t a
-    else match (norm_base r (fst v), snd v) with
-         | (BBranch b, []) =>                         (* dirty branch: `db/branch` is the branch's working set *)
-           match branch_working r b with
-           | Some w => match assoc t (d_schema w) with
-                       | Some cols => ans_eqb a (ARows cols (rows_of t (d_data w)))
-                       | None => is_error a
-                       end
-           | None => is_error a
-           end
-         | _ => match a with ARows _ _ | AHist _ _ => want_commit r v t a | _ => true end   (* refusing is fine; rows must be the right ones *)
-         end
-`    if revdb_denotes r v then want_commit r v t a
-    else match (norm_base r (fst v), snd v) with
-         | (BBranch b, []) =>                         (* dirty branch: `db/branch` is the branch's working set *)
-           match branch_working r b with
-           | Some w => match assoc t (d_schema w) with
-                       | Some cols => ans_eqb a (ARows cols (rows_of t (d_data w)))
-                       | None => is_error a
-                       end
-           | None => is_error a
-           end
-         | _ => match a with ARows _ _ | AHist _ _ => want_commit r v t a | _ => true end   (* refusing is fine; rows must be the right ones *)
-         end
-d    if revdb_denotes r v then want_commit r v t a
-    else match (norm_base r (fst v), snd v) with
-         | (BBranch b, []) =>                         (* dirty branch: `db/branch` is the branch's working set *)
-           match branch_working r b with
-           | Some w => match assoc t (d_schema w) with
-                       | Some cols => ans_eqb a (ARows cols (rows_of t (d_data w)))
-                       | None => is_error a
-                       end
-           | None => is_error a
-           end
-         | _ => match a with ARows _ _ | AHist _ _ => want_commit r v t a | _ => true end   (* refusing is fine; rows must be the right ones *)
-         end
-b    if revdb_denotes r v then want_commit r v t a
-    else match (norm_base r (fst v), snd v) with
-         | (BBranch b, []) =>                         (* dirty branch: `db/branch` is the branch's working set *)
-           match branch_working r b with
-           | Some w => match assoc t (d_schema w) with
-                       | Some cols => ans_eqb a (ARows cols (rows_of t (d_data w)))
-                       | None => is_error a
-                       end
-           | None => is_error a
-           end
-         | _ => match a with ARows _ _ | AHist _ _ => want_commit r v t a | _ => true end   (* refusing is fine; rows must be the right ones *)
-         end
-/    if revdb_denotes r v then want_commit r v t a
-    else match (norm_base r (fst v), snd v) with
-         | (BBranch b, []) =>                         (* dirty branch: `db/branch` is the branch's working set *)
-           match branch_working r b with
-           | Some w => match assoc t (d_schema w) with
-                       | Some cols => ans_eqb a (ARows cols (rows_of t (d_data w)))
-                       | None => is_error a
-                       end
-           | None => is_error a
-           end
-         | _ => match a with ARows _ _ | AHist _ _ => want_commit r v t a | _ => true end   (* refusing is fine; rows must be the right ones *)
-         end
-<    if revdb_denotes r v then want_commit r v t a
-    else match (norm_base r (fst v), snd v) with
-         | (BBranch b, []) =>                         (* dirty branch: `db/branch` is the branch's working set *)
-           match branch_working r b with
-           | Some w => match assoc t (d_schema w) with
-                       | Some cols => ans_eqb a (ARows cols (rows_of t (d_data w)))
-                       | None => is_error a
-                       end
-           | None => is_error a
-           end
-         | _ => match a with ARows _ _ | AHist _ _ => want_commit r v t a | _ => true end   (* refusing is fine; rows must be the right ones *)
-         end
-b    if revdb_denotes r v then want_commit r v t a
-    else match (norm_base r (fst v), snd v) with
-         | (BBranch b, []) =>                         (* dirty branch: `db/branch` is the branch's working set *)
-           match branch_working r b with
-           | Some w => match assoc t (d_schema w) with
-                       | Some cols => ans_eqb a (ARows cols (rows_of t (d_data w)))
-                       | None => is_error a
-                       end
-           | None => is_error a
-           end
-         | _ => match a with ARows _ _ | AHist _ _ => want_commit r v t a | _ => true end   (* refusing is fine; rows must be the right ones *)
-         end
-r    if revdb_denotes r v then want_commit r v t a
-    else match (norm_base r (fst v), snd v) with
-         | (BBranch b, []) =>                         (* dirty branch: `db/branch` is the branch's working set *)
-           match branch_working r b with
-           | Some w => match assoc t (d_schema w) with
-                       | Some cols => ans_eqb a (ARows cols (rows_of t (d_data w)))
-                       | None => is_error a
-                       end
-           | None => is_error a
-           end
-         | _ => match a with ARows _ _ | AHist _ _ => want_commit r v t a | _ => true end   (* refusing is fine; rows must be the right ones *)
-         end
-a    if revdb_denotes r v then want_commit r v t a
-    else match (norm_base r (fst v), snd v) with
-         | (BBranch b, []) =>                         (* dirty branch: `db/branch` is the branch's working set *)
-           match branch_working r b with
-           | Some w => match assoc t (d_schema w) with
-                       | Some cols => ans_eqb a (ARows cols (rows_of t (d_data w)))
-                       | None => is_error a
-                       end
-           | None => is_error a
-           end
-         | _ => match a with ARows _ _ | AHist _ _ => want_commit r v t a | _ => true end   (* refusing is fine; rows must be the right ones *)
-         end
-n    if revdb_denotes r v then want_commit r v t a
-    else match (norm_base r (fst v), snd v) with
-         | (BBranch b, []) =>                         (* dirty branch: `db/branch` is the branch's working set *)
-           match branch_working r b with
-           | Some w => match assoc t (d_schema w) with
-                       | Some cols => ans_eqb a (ARows cols (rows_of t (d_data w)))
-                       | None => is_error a
-                       end
-           | None => is_error a
-           end
-         | _ => match a with ARows _ _ | AHist _ _ => want_commit r v t a | _ => true end   (* refusing is fine; rows must be the right ones *)
-         end
-c    if revdb_denotes r v then want_commit r v t a
-    else match (norm_base r (fst v), snd v) with
-         | (BBranch b, []) =>                         (* dirty branch: `db/branch` is the branch's working set *)
-           match branch_working r b with
-           | Some w => match assoc t (d_schema w) with
-                       | Some cols => ans_eqb a (ARows cols (rows_of t (d_data w)))
-                       | None => is_error a
-                       end
-           | None => is_error a
-           end
-         | _ => match a with ARows _ _ | AHist _ _ => want_commit r v t a | _ => true end   (* refusing is fine; rows must be the right ones *)
-         end
-h    if revdb_denotes r v then want_commit r v t a
-    else match (norm_base r (fst v), snd v) with
-         | (BBranch b, []) =>                         (* dirty branch: `db/branch` is the branch's working set *)
-           match branch_working r b with
-           | Some w => match assoc t (d_schema w) with
-                       | Some cols => ans_eqb a (ARows cols (rows_of t (d_data w)))
-                       | None => is_error a
-                       end
-           | None => is_error a
-           end
-         | _ => match a with ARows _ _ | AHist _ _ => want_commit r v t a | _ => true end   (* refusing is fine; rows must be the right ones *)
-         end
->    if revdb_denotes r v then want_commit r v t a
-    else match (norm_base r (fst v), snd v) with
-         | (BBranch b, []) =>                         (* dirty branch: `db/branch` is the branch's working set *)
-           match branch_working r b with
-           | Some w => match assoc t (d_schema w) with
-                       | Some cols => ans_eqb a (ARows cols (rows_of t (d_data w)))
-                       | None => is_error a
-                       end
-           | None => is_error a
-           end
-         | _ => match a with ARows _ _ | AHist _ _ => want_commit r v t a | _ => true end   (* refusing is fine; rows must be the right ones *)
-         end
-`    if revdb_denotes r v then want_commit r v t a
-    else match (norm_base r (fst v), snd v) with
-         | (BBranch b, []) =>                         (* dirty branch: `db/branch` is the branch's working set *)
-           match branch_working r b with
-           | Some w => match assoc t (d_schema w) with
-                       | Some cols => ans_eqb a (ARows cols (rows_of t (d_data w)))
-                       | None => is_error a
-                       end
-           | None => is_error a
-           end
-         | _ => match a with ARows _ _ | AHist _ _ => want_commit r v t a | _ => true end   (* refusing is fine; rows must be the right ones *)
-         end
-     if revdb_denotes r v then want_commit r v t a
-    else match (norm_base r (fst v), snd v) with
-         | (BBranch b, []) =>                         (* dirty branch: `db/branch` is the branch's working set *)
-           match branch_working r b with
-           | Some w => match assoc t (d_schema w) with
-                       | Some cols => ans_eqb a (ARows cols (rows_of t (d_data w)))
-                       | None => is_error a
-                       end
-           | None => is_error a
-           end
-         | _ => match a with ARows _ _ | AHist _ _ => want_commit r v t a | _ => true end   (* refusing is fine; rows must be the right ones *)
-         end
-i    if revdb_denotes r v then want_commit r v t a
-    else match (norm_base r (fst v), snd v) with
-         | (BBranch b, []) =>                         (* dirty branch: `db/branch` is the branch's working set *)
-           match branch_working r b with
-           | Some w => match assoc t (d_schema w) with
-                       | Some cols => ans_eqb a (ARows cols (rows_of t (d_data w)))
-                       | None => is_error a
-                       end
-           | None => is_error a
-           end
-         | _ => match a with ARows _ _ | AHist _ _ => want_commit r v t a | _ => true end   (* refusing is fine; rows must be the right ones *)
-         end
-s    if revdb_denotes r v then want_commit r v t a
-    else match (norm_base r (fst v), snd v) with
-         | (BBranch b, []) =>                         (* dirty branch: `db/branch` is the branch's working set *)
-           match branch_working r b with
-           | Some w => match assoc t (d_schema w) with
-                       | Some cols => ans_eqb a (ARows cols (rows_of t (d_data w)))
-                       | None => is_error a
-                       end
-           | None => is_error a
-           end
-         | _ => match a with ARows _ _ | AHist _ _ => want_commit r v t a | _ => true end   (* refusing is fine; rows must be the right ones *)
-         end
-     if revdb_denotes r v then want_commit r v t a
-    else match (norm_base r (fst v), snd v) with
-         | (BBranch b, []) =>                         (* dirty branch: `db/branch` is the branch's working set *)
-           match branch_working r b with
-           | Some w => match assoc t (d_schema w) with
-                       | Some cols => ans_eqb a (ARows cols (rows_of t (d_data w)))
-                       | None => is_error a
-                       end
-           | None => is_error a
-           end
-         | _ => match a with ARows _ _ | AHist _ _ => want_commit r v t a | _ => true end   (* refusing is fine; rows must be the right ones *)
-         end
-t    if revdb_denotes r v then want_commit r v t a
-    else match (norm_base r (fst v), snd v) with
-         | (BBranch b, []) =>                         (* dirty branch: `db/branch` is the branch's working set *)
-           match branch_working r b with
-           | Some w => match assoc t (d_schema w) with
-                       | Some cols => ans_eqb a (ARows cols (rows_of t (d_data w)))
-                       | None => is_error a
-                       end
-           | None => is_error a
-           end
-         | _ => match a with ARows _ _ | AHist _ _ => want_commit r v t a | _ => true end   (* refusing is fine; rows must be the right ones *)
-         end
-h    if revdb_denotes r v then want_commit r v t a
-    else match (norm_base r (fst v), snd v) with
-         | (BBranch b, []) =>                         (* dirty branch: `db/branch` is the branch's working set *)
-           match branch_working r b with
-           | Some w => match assoc t (d_schema w) with
-                       | Some cols => ans_eqb a (ARows cols (rows_of t (d_data w)))
-                       | None => is_error a
-                       end
-           | None => is_error a
-           end
-         | _ => match a with ARows _ _ | AHist _ _ => want_commit r v t a | _ => true end   (* refusing is fine; rows must be the right ones *)
-         end
-e    if revdb_denotes r v then want_commit r v t a
-    else match (norm_base r (fst v), snd v) with
-         | (BBranch b, []) =>                         (* dirty branch: `db/branch` is the branch's working set *)
-           match branch_working r b with
-           | Some w => match assoc t (d_schema w) with
-                       | Some cols => ans_eqb a (ARows cols (rows_of t (d_data w)))
-                       | None => is_error a
-                       end
-           | None => is_error a
-           end
-         | _ => match a with ARows _ _ | AHist _ _ => want_commit r v t a | _ => true end   (* refusing is fine; rows must be the right ones *)
-         end
-     if revdb_denotes r v then want_commit r v t a
-    else match (norm_base r (fst v), snd v) with
-         | (BBranch b, []) =>                         (* dirty branch: `db/branch` is the branch's working set *)
-           match branch_working r b with
-           | Some w => match assoc t (d_schema w) with
-                       | Some cols => ans_eqb a (ARows cols (rows_of t (d_data w)))
-                       | None => is_error a
-                       end
-           | None => is_error a
-           end
-         | _ => match a with ARows _ _ | AHist _ _ => want_commit r v t a | _ => true end   (* refusing is fine; rows must be the right ones *)
-         end
-b    if revdb_denotes r v then want_commit r v t a
-    else match (norm_base r (fst v), snd v) with
-         | (BBranch b, []) =>                         (* dirty branch: `db/branch` is the branch's working set *)
-           match branch_working r b with
-           | Some w => match assoc t (d_schema w) with
-                       | Some cols => ans_eqb a (ARows cols (rows_of t (d_data w)))
-                       | None => is_error a
-                       end
-           | None => is_error a
-           end
-         | _ => match a with ARows _ _ | AHist _ _ => want_commit r v t a | _ => true end   (* refusing is fine; rows must be the right ones *)
-         end
-r    if revdb_denotes r v then want_commit r v t a
-    else match (norm_base r (fst v), snd v) with
-         | (BBranch b, []) =>                         (* dirty branch: `db/branch` is the branch's working set *)
-           match branch_working r b with
-           | Some w => match assoc t (d_schema w) with
-                       | Some cols => ans_eqb a (ARows cols (rows_of t (d_data w)))
-                       | None => is_error a
-                       end
-           | None => is_error a
-           end
-         | _ => match a with ARows _ _ | AHist _ _ => want_commit r v t a | _ => true end   (* refusing is fine; rows must be the right ones *)
-         end
-a    if revdb_denotes r v then want_commit r v t a
-    else match (norm_base r (fst v), snd v) with
-         | (BBranch b, []) =>                         (* dirty branch: `db/branch` is the branch's working set *)
-           match branch_working r b with
-           | Some w => match assoc t (d_schema w) with
-                       | Some cols => ans_eqb a (ARows cols (rows_of t (d_data w)))
-                       | None => is_error a
-                       end
-           | None => is_error a
-           end
-         | _ => match a with ARows _ _ | AHist _ _ => want_commit r v t a | _ => true end   (* refusing is fine; rows must be the right ones *)
-         end
-n    if revdb_denotes r v then want_commit r v t a
-    else match (norm_base r (fst v), snd v) with
-         | (BBranch b, []) =>                         (* dirty branch: `db/branch` is the branch's working set *)
-           match branch_working r b with
-           | Some w => match assoc t (d_schema w) with
-                       | Some cols => ans_eqb a (ARows cols (rows_of t (d_data w)))
-                       | None => is_error a
-                       end
-           | None => is_error a
-           end
-         | _ => match a with ARows _ _ | AHist _ _ => want_commit r v t a | _ => true end   (* refusing is fine; rows must be the right ones *)
-         end
-c    if revdb_denotes r v then want_commit r v t a
-    else match (norm_base r (fst v), snd v) with
-         | (BBranch b, []) =>                         (* dirty branch: `db/branch` is the branch's working set *)
-           match branch_working r b with
-           | Some w => match assoc t (d_schema w) with
-                       | Some cols => ans_eqb a (ARows cols (rows_of t (d_data w)))
-                       | None => is_error a
-                       end
-           | None => is_error a
-           end
-         | _ => match a with ARows _ _ | AHist _ _ => want_commit r v t a | _ => true end   (* refusing is fine; rows must be the right ones *)
-         end
-h    if revdb_denotes r v then want_commit r v t a
-    else match (norm_base r (fst v), snd v) with
-         | (BBranch b, []) =>                         (* dirty branch: `db/branch` is the branch's working set *)
-           match branch_working r b with
-           | Some w => match assoc t (d_schema w) with
-                       | Some cols => ans_eqb a (ARows cols (rows_of t (d_data w)))
-                       | None => is_error a
-                       end
-           | None => is_error a
-           end
-         | _ => match a with ARows _ _ | AHist _ _ => want_commit r v t a | _ => true end   (* refusing is fine; rows must be the right ones *)
-         end
-'    if revdb_denotes r v then want_commit r v t a
-    else match (norm_base r (fst v), snd v) with
-         | (BBranch b, []) =>                         (* dirty branch: `db/branch` is the branch's working set *)
-           match branch_working r b with
-           | Some w => match assoc t (d_schema w) with
-                       | Some cols => ans_eqb a (ARows cols (rows_of t (d_data w)))
-                       | None => is_error a
-                       end
-           | None => is_error a
-           end
-         | _ => match a with ARows _ _ | AHist _ _ => want_commit r v t a | _ => true end   (* refusing is fine; rows must be the right ones *)
-         end
-s    if revdb_denotes r v then want_commit r v t a
-    else match (norm_base r (fst v), snd v) with
-         | (BBranch b, []) =>                         (* dirty branch: `db/branch` is the branch's working set *)
-           match branch_working r b with
-           | Some w => match assoc t (d_schema w) with
-                       | Some cols => ans_eqb a (ARows cols (rows_of t (d_data w)))
-                       | None => is_error a
-                       end
-           | None => is_error a
-           end
-         | _ => match a with ARows _ _ | AHist _ _ => want_commit r v t a | _ => true end   (* refusing is fine; rows must be the right ones *)
-         end
-     if revdb_denotes r v then want_commit r v t a
-    else match (norm_base r (fst v), snd v) with
-         | (BBranch b, []) =>                         (* dirty branch: `db/branch` is the branch's working set *)
-           match branch_working r b with
-           | Some w => match assoc t (d_schema w) with
-                       | Some cols => ans_eqb a (ARows cols (rows_of t (d_data w)))
-                       | None => is_error a
-                       end
-           | None => is_error a
-           end
-         | _ => match a with ARows _ _ | AHist _ _ => want_commit r v t a | _ => true end   (* refusing is fine; rows must be the right ones *)
-         end
-w    if revdb_denotes r v then want_commit r v t a
-    else match (norm_base r (fst v), snd v) with
-         | (BBranch b, []) =>                         (* dirty branch: `db/branch` is the branch's working set *)
-           match branch_working r b with
-           | Some w => match assoc t (d_schema w) with
-                       | Some cols => ans_eqb a (ARows cols (rows_of t (d_data w)))
-                       | None => is_error a
-                       end
-           | None => is_error a
-           end
-         | _ => match a with ARows _ _ | AHist _ _ => want_commit r v t a | _ => true end   (* refusing is fine; rows must be the right ones *)
-         end
-o    if revdb_denotes r v then want_commit r v t a
-    else match (norm_base r (fst v), snd v) with
-         | (BBranch b, []) =>                         (* dirty branch: `db/branch` is the branch's working set *)
-           match branch_working r b with
-           | Some w => match assoc t (d_schema w) with
-                       | Some cols => ans_eqb a (ARows cols (rows_of t (d_data w)))
-                       | None => is_error a
-                       end
-           | None => is_error a
-           end
-         | _ => match a with ARows _ _ | AHist _ _ => want_commit r v t a | _ => true end   (* refusing is fine; rows must be the right ones *)
-         end
-r    if revdb_denotes r v then want_commit r v t a
-    else match (norm_base r (fst v), snd v) with
-         | (BBranch b, []) =>                         (* dirty branch: `db/branch` is the branch's working set *)
-           match branch_working r b with
-           | Some w => match assoc t (d_schema w) with
-                       | Some cols => ans_eqb a (ARows cols (rows_of t (d_data w)))
-                       | None => is_error a
-                       end
-           | None => is_error a
-           end
-         | _ => match a with ARows _ _ | AHist _ _ => want_commit r v t a | _ => true end   (* refusing is fine; rows must be the right ones *)
-         end
-k    if revdb_denotes r v then want_commit r v t a
-    else match (norm_base r (fst v), snd v) with
-         | (BBranch b, []) =>                         (* dirty branch: `db/branch` is the branch's working set *)
-           match branch_working r b with
-           | Some w => match assoc t (d_schema w) with
-                       | Some cols => ans_eqb a (ARows cols (rows_of t (d_data w)))
-                       | None => is_error a
-                       end
-           | None => is_error a
-           end
-         | _ => match a with ARows _ _ | AHist _ _ => want_commit r v t a | _ => true end   (* refusing is fine; rows must be the right ones *)
-         end
-i    if revdb_denotes r v then want_commit r v t a
-    else match (norm_base r (fst v), snd v) with
-         | (BBranch b, []) =>                         (* dirty branch: `db/branch` is the branch's working set *)
-           match branch_working r b with
-           | Some w => match assoc t (d_schema w) with
-                       | Some cols => ans_eqb a (ARows cols (rows_of t (d_data w)))
-                       | None => is_error a
-                       end
-           | None => is_error a
-           end
-         | _ => match a with ARows _ _ | AHist _ _ => want_commit r v t a | _ => true end   (* refusing is fine; rows must be the right ones *)
-         end
-n    if revdb_denotes r v then want_commit r v t a
-    else match (norm_base r (fst v), snd v) with
-         | (BBranch b, []) =>                         (* dirty branch: `db/branch` is the branch's working set *)
-           match branch_working r b with
-           | Some w => match assoc t (d_schema w) with
-                       | Some cols => ans_eqb a (ARows cols (rows_of t (d_data w)))
-                       | None => is_error a
-                       end
-           | None => is_error a
-           end
-         | _ => match a with ARows _ _ | AHist _ _ => want_commit r v t a | _ => true end   (* refusing is fine; rows must be the right ones *)
-         end
-g    if revdb_denotes r v then want_commit r v t a
-    else match (norm_base r (fst v), snd v) with
-         | (BBranch b, []) =>                         (* dirty branch: `db/branch` is the branch's working set *)
-           match branch_working r b with
-           | Some w => match assoc t (d_schema w) with
-                       | Some cols => ans_eqb a (ARows cols (rows_of t (d_data w)))
-                       | None => is_error a
-                       end
-           | None => is_error a
-           end
-         | _ => match a with ARows _ _ | AHist _ _ => want_commit r v t a | _ => true end   (* refusing is fine; rows must be the right ones *)
-         end
-     if revdb_denotes r v then want_commit r v t a
-    else match (norm_base r (fst v), snd v) with
-         | (BBranch b, []) =>                         (* dirty branch: `db/branch` is the branch's working set *)
-           match branch_working r b with
-           | Some w => match assoc t (d_schema w) with
-                       | Some cols => ans_eqb a (ARows cols (rows_of t (d_data w)))
-                       | None => is_error a
-                       end
-           | None => is_error a
-           end
-         | _ => match a with ARows _ _ | AHist _ _ => want_commit r v t a | _ => true end   (* refusing is fine; rows must be the right ones *)
-         end
-s    if revdb_denotes r v then want_commit r v t a
-    else match (norm_base r (fst v), snd v) with
-         | (BBranch b, []) =>                         (* dirty branch: `db/branch` is the branch's working set *)
-           match branch_working r b with
-           | Some w => match assoc t (d_schema w) with
-                       | Some cols => ans_eqb a (ARows cols (rows_of t (d_data w)))
-                       | None => is_error a
-                       end
-           | None => is_error a
-           end
-         | _ => match a with ARows _ _ | AHist _ _ => want_commit r v t a | _ => true end   (* refusing is fine; rows must be the right ones *)
-         end
-e    if revdb_denotes r v then want_commit r v t a
-    else match (norm_base r (fst v), snd v) with
-         | (BBranch b, []) =>                         (* dirty branch: `db/branch` is the branch's working set *)
-           match branch_working r b with
-           | Some w => match assoc t (d_schema w) with
-                       | Some cols => ans_eqb a (ARows cols (rows_of t (d_data w)))
-                       | None => is_error a
-                       end
-           | None => is_error a
-           end
-         | _ => match a with ARows _ _ | AHist _ _ => want_commit r v t a | _ => true end   (* refusing is fine; rows must be the right ones *)
-         end
-t    if revdb_denotes r v then want_commit r v t a
-    else match (norm_base r (fst v), snd v) with
-         | (BBranch b, []) =>                         (* dirty branch: `db/branch` is the branch's working set *)
-           match branch_working r b with
-           | Some w => match assoc t (d_schema w) with
-                       | Some cols => ans_eqb a (ARows cols (rows_of t (d_data w)))
-                       | None => is_error a
-                       end
-           | None => is_error a
-           end
-         | _ => match a with ARows _ _ | AHist _ _ => want_commit r v t a | _ => true end   (* refusing is fine; rows must be the right ones *)
-         end
-:    if revdb_denotes r v then want_commit r v t a
-    else match (norm_base r (fst v), snd v) with
-         | (BBranch b, []) =>                         (* dirty branch: `db/branch` is the branch's working set *)
-           match branch_working r b with
-           | Some w => match assoc t (d_schema w) with
-                       | Some cols => ans_eqb a (ARows cols (rows_of t (d_data w)))
-                       | None => is_error a
-                       end
-           | None => is_error a
-           end
-         | _ => match a with ARows _ _ | AHist _ _ => want_commit r v t a | _ => true end   (* refusing is fine; rows must be the right ones *)
-         end
-     if revdb_denotes r v then want_commit r v t a
-    else match (norm_base r (fst v), snd v) with
-         | (BBranch b, []) =>                         (* dirty branch: `db/branch` is the branch's working set *)
-           match branch_working r b with
-           | Some w => match assoc t (d_schema w) with
-                       | Some cols => ans_eqb a (ARows cols (rows_of t (d_data w)))
-                       | None => is_error a
-                       end
-           | None => is_error a
-           end
-         | _ => match a with ARows _ _ | AHist _ _ => want_commit r v t a | _ => true end   (* refusing is fine; rows must be the right ones *)
-         end
-i    if revdb_denotes r v then want_commit r v t a
-    else match (norm_base r (fst v), snd v) with
-         | (BBranch b, []) =>                         (* dirty branch: `db/branch` is the branch's working set *)
-           match branch_working r b with
-           | Some w => match assoc t (d_schema w) with
-                       | Some cols => ans_eqb a (ARows cols (rows_of t (d_data w)))
-                       | None => is_error a
-                       end
-           | None => is_error a
-           end
-         | _ => match a with ARows _ _ | AHist _ _ => want_commit r v t a | _ => true end   (* refusing is fine; rows must be the right ones *)
-         end
-t    if revdb_denotes r v then want_commit r v t a
-    else match (norm_base r (fst v), snd v) with
-         | (BBranch b, []) =>                         (* dirty branch: `db/branch` is the branch's working set *)
-           match branch_working r b with
-           | Some w => match assoc t (d_schema w) with
-                       | Some cols => ans_eqb a (ARows cols (rows_of t (d_data w)))
-                       | None => is_error a
-                       end
-           | None => is_error a
-           end
-         | _ => match a with ARows _ _ | AHist _ _ => want_commit r v t a | _ => true end   (* refusing is fine; rows must be the right ones *)
-         end
-     if revdb_denotes r v then want_commit r v t a
-    else match (norm_base r (fst v), snd v) with
-         | (BBranch b, []) =>                         (* dirty branch: `db/branch` is the branch's working set *)
-           match branch_working r b with
-           | Some w => match assoc t (d_schema w) with
-                       | Some cols => ans_eqb a (ARows cols (rows_of t (d_data w)))
-                       | None => is_error a
-                       end
-           | None => is_error a
-           end
-         | _ => match a with ARows _ _ | AHist _ _ => want_commit r v t a | _ => true end   (* refusing is fine; rows must be the right ones *)
-         end
-d    if revdb_denotes r v then want_commit r v t a
-    else match (norm_base r (fst v), snd v) with
-         | (BBranch b, []) =>                         (* dirty branch: `db/branch` is the branch's working set *)
-           match branch_working r b with
-           | Some w => match assoc t (d_schema w) with
-                       | Some cols => ans_eqb a (ARows cols (rows_of t (d_data w)))
-                       | None => is_error a
-                       end
-           | None => is_error a
-           end
-         | _ => match a with ARows _ _ | AHist _ _ => want_commit r v t a | _ => true end   (* refusing is fine; rows must be the right ones *)
-         end
-e    if revdb_denotes r v then want_commit r v t a
-    else match (norm_base r (fst v), snd v) with
-         | (BBranch b, []) =>                         (* dirty branch: `db/branch` is the branch's working set *)
-           match branch_working r b with
-           | Some w => match assoc t (d_schema w) with
-                       | Some cols => ans_eqb a (ARows cols (rows_of t (d_data w)))
-                       | None => is_error a
-                       end
-           | None => is_error a
-           end
-         | _ => match a with ARows _ _ | AHist _ _ => want_commit r v t a | _ => true end   (* refusing is fine; rows must be the right ones *)
-         end
-n    if revdb_denotes r v then want_commit r v t a
-    else match (norm_base r (fst v), snd v) with
-         | (BBranch b, []) =>                         (* dirty branch: `db/branch` is the branch's working set *)
-           match branch_working r b with
-           | Some w => match assoc t (d_schema w) with
-                       | Some cols => ans_eqb a (ARows cols (rows_of t (d_data w)))
-                       | None => is_error a
-                       end
-           | None => is_error a
-           end
-         | _ => match a with ARows _ _ | AHist _ _ => want_commit r v t a | _ => true end   (* refusing is fine; rows must be the right ones *)
-         end
-o    if revdb_denotes r v then want_commit r v t a
-    else match (norm_base r (fst v), snd v) with
-         | (BBranch b, []) =>                         (* dirty branch: `db/branch` is the branch's working set *)
-           match branch_working r b with
-           | Some w => match assoc t (d_schema w) with
-                       | Some cols => ans_eqb a (ARows cols (rows_of t (d_data w)))
-                       | None => is_error a
-                       end
-           | None => is_error a
-           end
-         | _ => match a with ARows _ _ | AHist _ _ => want_commit r v t a | _ => true end   (* refusing is fine; rows must be the right ones *)
-         end
-t    if revdb_denotes r v then want_commit r v t a
-    else match (norm_base r (fst v), snd v) with
-         | (BBranch b, []) =>                         (* dirty branch: `db/branch` is the branch's working set *)
-           match branch_working r b with
-           | Some w => match assoc t (d_schema w) with
-                       | Some cols => ans_eqb a (ARows cols (rows_of t (d_data w)))
-                       | None => is_error a
-                       end
-           | None => is_error a
-           end
-         | _ => match a with ARows _ _ | AHist _ _ => want_commit r v t a | _ => true end   (* refusing is fine; rows must be the right ones *)
-         end
-e    if revdb_denotes r v then want_commit r v t a
-    else match (norm_base r (fst v), snd v) with
-         | (BBranch b, []) =>                         (* dirty branch: `db/branch` is the branch's working set *)
-           match branch_working r b with
-           | Some w => match assoc t (d_schema w) with
-                       | Some cols => ans_eqb a (ARows cols (rows_of t (d_data w)))
-                       | None => is_error a
-                       end
-           | None => is_error a
-           end
-         | _ => match a with ARows _ _ | AHist _ _ => want_commit r v t a | _ => true end   (* refusing is fine; rows must be the right ones *)
-         end
-s    if revdb_denotes r v then want_commit r v t a
-    else match (norm_base r (fst v), snd v) with
-         | (BBranch b, []) =>                         (* dirty branch: `db/branch` is the branch's working set *)
-           match branch_working r b with
-           | Some w => match assoc t (d_schema w) with
-                       | Some cols => ans_eqb a (ARows cols (rows_of t (d_data w)))
-                       | None => is_error a
-                       end
-           | None => is_error a
-           end
-         | _ => match a with ARows _ _ | AHist _ _ => want_commit r v t a | _ => true end   (* refusing is fine; rows must be the right ones *)
-         end
-     if revdb_denotes r v then want_commit r v t a
-    else match (norm_base r (fst v), snd v) with
-         | (BBranch b, []) =>                         (* dirty branch: `db/branch` is the branch's working set *)
-           match branch_working r b with
-           | Some w => match assoc t (d_schema w) with
-                       | Some cols => ans_eqb a (ARows cols (rows_of t (d_data w)))
-                       | None => is_error a
-                       end
-           | None => is_error a
-           end
-         | _ => match a with ARows _ _ | AHist _ _ => want_commit r v t a | _ => true end   (* refusing is fine; rows must be the right ones *)
-         end
-a    if revdb_denotes r v then want_commit r v t a
-    else match (norm_base r (fst v), snd v) with
-         | (BBranch b, []) =>                         (* dirty branch: `db/branch` is the branch's working set *)
-           match branch_working r b with
-           | Some w => match assoc t (d_schema w) with
-                       | Some cols => ans_eqb a (ARows cols (rows_of t (d_data w)))
-                       | None => is_error a
-                       end
-           | None => is_error a
-           end
-         | _ => match a with ARows _ _ | AHist _ _ => want_commit r v t a | _ => true end   (* refusing is fine; rows must be the right ones *)
-         end
-
-    if revdb_denotes r v then want_commit r v t a
-    else match (norm_base r (fst v), snd v) with
-         | (BBranch b, []) =>                         (* dirty branch: `db/branch` is the branch's working set *)
-           match branch_working r b with
-           | Some w => match assoc t (d_schema w) with
-                       | Some cols => ans_eqb a (ARows cols (rows_of t (d_data w)))
-                       | None => is_error a
-                       end
-           | None => is_error a
-           end
-         | _ => match a with ARows _ _ | AHist _ _ => want_commit r v t a | _ => true end   (* refusing is fine; rows must be the right ones *)
-         end
-     if revdb_denotes r v then want_commit r v t a
-    else match (norm_base r (fst v), snd v) with
-         | (BBranch b, []) =>                         (* dirty branch: `db/branch` is the branch's working set *)
-           match branch_working r b with
-           | Some w => match assoc t (d_schema w) with
-                       | Some cols => ans_eqb a (ARows cols (rows_of t (d_data w)))
-                       | None => is_error a
-                       end
-           | None => is_error a
-           end
-         | _ => match a with ARows _ _ | AHist _ _ => want_commit r v t a | _ => true end   (* refusing is fine; rows must be the right ones *)
-         end
-     if revdb_denotes r v then want_commit r v t a
-    else match (norm_base r (fst v), snd v) with
-         | (BBranch b, []) =>                         (* dirty branch: `db/branch` is the branch's working set *)
-           match branch_working r b with
-           | Some w => match assoc t (d_schema w) with
-                       | Some cols => ans_eqb a (ARows cols (rows_of t (d_data w)))
-                       | None => is_error a
-                       end
-           | None => is_error a
-           end
-         | _ => match a with ARows _ _ | AHist _ _ => want_commit r v t a | _ => true end   (* refusing is fine; rows must be the right ones *)
-         end
-     if revdb_denotes r v then want_commit r v t a
-    else match (norm_base r (fst v), snd v) with
-         | (BBranch b, []) =>                         (* dirty branch: `db/branch` is the branch's working set *)
-           match branch_working r b with
-           | Some w => match assoc t (d_schema w) with
-                       | Some cols => ans_eqb a (ARows cols (rows_of t (d_data w)))
-                       | None => is_error a
-                       end
-           | None => is_error a
-           end
-         | _ => match a with ARows _ _ | AHist _ _ => want_commit r v t a | _ => true end   (* refusing is fine; rows must be the right ones *)
-         end
-c    if revdb_denotes r v then want_commit r v t a
-    else match (norm_base r (fst v), snd v) with
-         | (BBranch b, []) =>                         (* dirty branch: `db/branch` is the branch's working set *)
-           match branch_working r b with
-           | Some w => match assoc t (d_schema w) with
-                       | Some cols => ans_eqb a (ARows cols (rows_of t (d_data w)))
-                       | None => is_error a
-                       end
-           | None => is_error a
-           end
-         | _ => match a with ARows _ _ | AHist _ _ => want_commit r v t a | _ => true end   (* refusing is fine; rows must be the right ones *)
-         end
-o    if revdb_denotes r v then want_commit r v t a
-    else match (norm_base r (fst v), snd v) with
-         | (BBranch b, []) =>                         (* dirty branch: `db/branch` is the branch's working set *)
-           match branch_working r b with
-           | Some w => match assoc t (d_schema w) with
-                       | Some cols => ans_eqb a (ARows cols (rows_of t (d_data w)))
-                       | None => is_error a
-                       end
-           | None => is_error a
-           end
-         | _ => match a with ARows _ _ | AHist _ _ => want_commit r v t a | _ => true end   (* refusing is fine; rows must be the right ones *)
-         end
-m    if revdb_denotes r v then want_commit r v t a
-    else match (norm_base r (fst v), snd v) with
-         | (BBranch b, []) =>                         (* dirty branch: `db/branch` is the branch's working set *)
-           match branch_working r b with
-           | Some w => match assoc t (d_schema w) with
-                       | Some cols => ans_eqb a (ARows cols (rows_of t (d_data w)))
-                       | None => is_error a
-                       end
-           | None => is_error a
-           end
-         | _ => match a with ARows _ _ | AHist _ _ => want_commit r v t a | _ => true end   (* refusing is fine; rows must be the right ones *)
-         end
-m    if revdb_denotes r v then want_commit r v t a
-    else match (norm_base r (fst v), snd v) with
-         | (BBranch b, []) =>                         (* dirty branch: `db/branch` is the branch's working set *)
-           match branch_working r b with
-           | Some w => match assoc t (d_schema w) with
-                       | Some cols => ans_eqb a (ARows cols (rows_of t (d_data w)))
-                       | None => is_error a
-                       end
-           | None => is_error a
-           end
-         | _ => match a with ARows _ _ | AHist _ _ => want_commit r v t a | _ => true end   (* refusing is fine; rows must be the right ones *)
-         end
-i    if revdb_denotes r v then want_commit r v t a
-    else match (norm_base r (fst v), snd v) with
-         | (BBranch b, []) =>                         (* dirty branch: `db/branch` is the branch's working set *)
-           match branch_working r b with
-           | Some w => match assoc t (d_schema w) with
-                       | Some cols => ans_eqb a (ARows cols (rows_of t (d_data w)))
-                       | None => is_error a
-                       end
-           | None => is_error a
-           end
-         | _ => match a with ARows _ _ | AHist _ _ => want_commit r v t a | _ => true end   (* refusing is fine; rows must be the right ones *)
-         end
-t    if revdb_denotes r v then want_commit r v t a
-    else match (norm_base r (fst v), snd v) with
-         | (BBranch b, []) =>                         (* dirty branch: `db/branch` is the branch's working set *)
-           match branch_working r b with
-           | Some w => match assoc t (d_schema w) with
-                       | Some cols => ans_eqb a (ARows cols (rows_of t (d_data w)))
-                       | None => is_error a
-                       end
-           | None => is_error a
-           end
-         | _ => match a with ARows _ _ | AHist _ _ => want_commit r v t a | _ => true end   (* refusing is fine; rows must be the right ones *)
-         end
-     if revdb_denotes r v then want_commit r v t a
-    else match (norm_base r (fst v), snd v) with
-         | (BBranch b, []) =>                         (* dirty branch: `db/branch` is the branch's working set *)
-           match branch_working r b with
-           | Some w => match assoc t (d_schema w) with
-                       | Some cols => ans_eqb a (ARows cols (rows_of t (d_data w)))
-                       | None => is_error a
-                       end
-           | None => is_error a
-           end
-         | _ => match a with ARows _ _ | AHist _ _ => want_commit r v t a | _ => true end   (* refusing is fine; rows must be the right ones *)
-         end
-o    if revdb_denotes r v then want_commit r v t a
-    else match (norm_base r (fst v), snd v) with
-         | (BBranch b, []) =>                         (* dirty branch: `db/branch` is the branch's working set *)
-           match branch_working r b with
-           | Some w => match assoc t (d_schema w) with
-                       | Some cols => ans_eqb a (ARows cols (rows_of t (d_data w)))
-                       | None => is_error a
-                       end
-           | None => is_error a
-           end
-         | _ => match a with ARows _ _ | AHist _ _ => want_commit r v t a | _ => true end   (* refusing is fine; rows must be the right ones *)
-         end
-n    if revdb_denotes r v then want_commit r v t a
-    else match (norm_base r (fst v), snd v) with
-         | (BBranch b, []) =>                         (* dirty branch: `db/branch` is the branch's working set *)
-           match branch_working r b with
-           | Some w => match assoc t (d_schema w) with
-                       | Some cols => ans_eqb a (ARows cols (rows_of t (d_data w)))
-                       | None => is_error a
-                       end
-           | None => is_error a
-           end
-         | _ => match a with ARows _ _ | AHist _ _ => want_commit r v t a | _ => true end   (* refusing is fine; rows must be the right ones *)
-         end
-l    if revdb_denotes r v then want_commit r v t a
-    else match (norm_base r (fst v), snd v) with
-         | (BBranch b, []) =>                         (* dirty branch: `db/branch` is the branch's working set *)
-           match branch_working r b with
-           | Some w => match assoc t (d_schema w) with
-                       | Some cols => ans_eqb a (ARows cols (rows_of t (d_data w)))
-                       | None => is_error a
-                       end
-           | None => is_error a
-           end
-         | _ => match a with ARows _ _ | AHist _ _ => want_commit r v t a | _ => true end   (* refusing is fine; rows must be the right ones *)
-         end
-y    if revdb_denotes r v then want_commit r v t a
-    else match (norm_base r (fst v), snd v) with
-         | (BBranch b, []) =>                         (* dirty branch: `db/branch` is the branch's working set *)
-           match branch_working r b with
-           | Some w => match assoc t (d_schema w) with
-                       | Some cols => ans_eqb a (ARows cols (rows_of t (d_data w)))
-                       | None => is_error a
-                       end
-           | None => is_error a
-           end
-         | _ => match a with ARows _ _ | AHist _ _ => want_commit r v t a | _ => true end   (* refusing is fine; rows must be the right ones *)
-         end
-     if revdb_denotes r v then want_commit r v t a
-    else match (norm_base r (fst v), snd v) with
-         | (BBranch b, []) =>                         (* dirty branch: `db/branch` is the branch's working set *)
-           match branch_working r b with
-           | Some w => match assoc t (d_schema w) with
-                       | Some cols => ans_eqb a (ARows cols (rows_of t (d_data w)))
-                       | None => is_error a
-                       end
-           | None => is_error a
-           end
-         | _ => match a with ARows _ _ | AHist _ _ => want_commit r v t a | _ => true end   (* refusing is fine; rows must be the right ones *)
-         end
-w    if revdb_denotes r v then want_commit r v t a
-    else match (norm_base r (fst v), snd v) with
-         | (BBranch b, []) =>                         (* dirty branch: `db/branch` is the branch's working set *)
-           match branch_working r b with
-           | Some w => match assoc t (d_schema w) with
-                       | Some cols => ans_eqb a (ARows cols (rows_of t (d_data w)))
-                       | None => is_error a
-                       end
-           | None => is_error a
-           end
-         | _ => match a with ARows _ _ | AHist _ _ => want_commit r v t a | _ => true end   (* refusing is fine; rows must be the right ones *)
-         end
-h    if revdb_denotes r v then want_commit r v t a
-    else match (norm_base r (fst v), snd v) with
-         | (BBranch b, []) =>                         (* dirty branch: `db/branch` is the branch's working set *)
-           match branch_working r b with
-           | Some w => match assoc t (d_schema w) with
-                       | Some cols => ans_eqb a (ARows cols (rows_of t (d_data w)))
-                       | None => is_error a
-                       end
-           | None => is_error a
-           end
-         | _ => match a with ARows _ _ | AHist _ _ => want_commit r v t a | _ => true end   (* refusing is fine; rows must be the right ones *)
-         end
-e    if revdb_denotes r v then want_commit r v t a
-    else match (norm_base r (fst v), snd v) with
-         | (BBranch b, []) =>                         (* dirty branch: `db/branch` is the branch's working set *)
-           match branch_working r b with
-           | Some w => match assoc t (d_schema w) with
-                       | Some cols => ans_eqb a (ARows cols (rows_of t (d_data w)))
-                       | None => is_error a
-                       end
-           | None => is_error a
-           end
-         | _ => match a with ARows _ _ | AHist _ _ => want_commit r v t a | _ => true end   (* refusing is fine; rows must be the right ones *)
-         end
-n    if revdb_denotes r v then want_commit r v t a
-    else match (norm_base r (fst v), snd v) with
-         | (BBranch b, []) =>                         (* dirty branch: `db/branch` is the branch's working set *)
-           match branch_working r b with
-           | Some w => match assoc t (d_schema w) with
-                       | Some cols => ans_eqb a (ARows cols (rows_of t (d_data w)))
-                       | None => is_error a
-                       end
-           | None => is_error a
-           end
-         | _ => match a with ARows _ _ | AHist _ _ => want_commit r v t a | _ => true end   (* refusing is fine; rows must be the right ones *)
-         end
-     if revdb_denotes r v then want_commit r v t a
-    else match (norm_base r (fst v), snd v) with
-         | (BBranch b, []) =>                         (* dirty branch: `db/branch` is the branch's working set *)
-           match branch_working r b with
-           | Some w => match assoc t (d_schema w) with
-                       | Some cols => ans_eqb a (ARows cols (rows_of t (d_data w)))
-                       | None => is_error a
-                       end
-           | None => is_error a
-           end
-         | _ => match a with ARows _ _ | AHist _ _ => want_commit r v t a | _ => true end   (* refusing is fine; rows must be the right ones *)
-         end
-t    if revdb_denotes r v then want_commit r v t a
-    else match (norm_base r (fst v), snd v) with
-         | (BBranch b, []) =>                         (* dirty branch: `db/branch` is the branch's working set *)
-           match branch_working r b with
-           | Some w => match assoc t (d_schema w) with
-                       | Some cols => ans_eqb a (ARows cols (rows_of t (d_data w)))
-                       | None => is_error a
-                       end
-           | None => is_error a
-           end
-         | _ => match a with ARows _ _ | AHist _ _ => want_commit r v t a | _ => true end   (* refusing is fine; rows must be the right ones *)
-         end
-h    if revdb_denotes r v then want_commit r v t a
-    else match (norm_base r (fst v), snd v) with
-         | (BBranch b, []) =>                         (* dirty branch: `db/branch` is the branch's working set *)
-           match branch_working r b with
-           | Some w => match assoc t (d_schema w) with
-                       | Some cols => ans_eqb a (ARows cols (rows_of t (d_data w)))
-                       | None => is_error a
-                       end
-           | None => is_error a
-           end
-         | _ => match a with ARows _ _ | AHist _ _ => want_commit r v t a | _ => true end   (* refusing is fine; rows must be the right ones *)
-         end
-e    if revdb_denotes r v then want_commit r v t a
-    else match (norm_base r (fst v), snd v) with
-         | (BBranch b, []) =>                         (* dirty branch: `db/branch` is the branch's working set *)
-           match branch_working r b with
-           | Some w => match assoc t (d_schema w) with
-                       | Some cols => ans_eqb a (ARows cols (rows_of t (d_data w)))
-                       | None => is_error a
-                       end
-           | None => is_error a
-           end
-         | _ => match a with ARows _ _ | AHist _ _ => want_commit r v t a | _ => true end   (* refusing is fine; rows must be the right ones *)
-         end
-     if revdb_denotes r v then want_commit r v t a
-    else match (norm_base r (fst v), snd v) with
-         | (BBranch b, []) =>                         (* dirty branch: `db/branch` is the branch's working set *)
-           match branch_working r b with
-           | Some w => match assoc t (d_schema w) with
-                       | Some cols => ans_eqb a (ARows cols (rows_of t (d_data w)))
-                       | None => is_error a
-                       end
-           | None => is_error a
-           end
-         | _ => match a with ARows _ _ | AHist _ _ => want_commit r v t a | _ => true end   (* refusing is fine; rows must be the right ones *)
-         end
-b    if revdb_denotes r v then want_commit r v t a
-    else match (norm_base r (fst v), snd v) with
-         | (BBranch b, []) =>                         (* dirty branch: `db/branch` is the branch's working set *)
-           match branch_working r b with
-           | Some w => match assoc t (d_schema w) with
-                       | Some cols => ans_eqb a (ARows cols (rows_of t (d_data w)))
-                       | None => is_error a
-                       end
-           | None => is_error a
-           end
-         | _ => match a with ARows _ _ | AHist _ _ => want_commit r v t a | _ => true end   (* refusing is fine; rows must be the right ones *)
-         end
-r    if revdb_denotes r v then want_commit r v t a
-    else match (norm_base r (fst v), snd v) with
-         | (BBranch b, []) =>                         (* dirty branch: `db/branch` is the branch's working set *)
-           match branch_working r b with
-           | Some w => match assoc t (d_schema w) with
-                       | Some cols => ans_eqb a (ARows cols (rows_of t (d_data w)))
-                       | None => is_error a
-                       end
-           | None => is_error a
-           end
-         | _ => match a with ARows _ _ | AHist _ _ => want_commit r v t a | _ => true end   (* refusing is fine; rows must be the right ones *)
-         end
-a    if revdb_denotes r v then want_commit r v t a
-    else match (norm_base r (fst v), snd v) with
-         | (BBranch b, []) =>                         (* dirty branch: `db/branch` is the branch's working set *)
-           match branch_working r b with
-           | Some w => match assoc t (d_schema w) with
-                       | Some cols => ans_eqb a (ARows cols (rows_of t (d_data w)))
-                       | None => is_error a
-                       end
-           | None => is_error a
-           end
-         | _ => match a with ARows _ _ | AHist _ _ => want_commit r v t a | _ => true end   (* refusing is fine; rows must be the right ones *)
-         end
-n    if revdb_denotes r v then want_commit r v t a
-    else match (norm_base r (fst v), snd v) with
-         | (BBranch b, []) =>                         (* dirty branch: `db/branch` is the branch's working set *)
-           match branch_working r b with
-           | Some w => match assoc t (d_schema w) with
-                       | Some cols => ans_eqb a (ARows cols (rows_of t (d_data w)))
-                       | None => is_error a
-                       end
-           | None => is_error a
-           end
-         | _ => match a with ARows _ _ | AHist _ _ => want_commit r v t a | _ => true end   (* refusing is fine; rows must be the right ones *)
-         end
-c    if revdb_denotes r v then want_commit r v t a
-    else match (norm_base r (fst v), snd v) with
-         | (BBranch b, []) =>                         (* dirty branch: `db/branch` is the branch's working set *)
-           match branch_working r b with
-           | Some w => match assoc t (d_schema w) with
-                       | Some cols => ans_eqb a (ARows cols (rows_of t (d_data w)))
-                       | None => is_error a
-                       end
-           | None => is_error a
-           end
-         | _ => match a with ARows _ _ | AHist _ _ => want_commit r v t a | _ => true end   (* refusing is fine; rows must be the right ones *)
-         end
-h    if revdb_denotes r v then want_commit r v t a
-    else match (norm_base r (fst v), snd v) with
-         | (BBranch b, []) =>                         (* dirty branch: `db/branch` is the branch's working set *)
-           match branch_working r b with
-           | Some w => match assoc t (d_schema w) with
-                       | Some cols => ans_eqb a (ARows cols (rows_of t (d_data w)))
-                       | None => is_error a
-                       end
-           | None => is_error a
-           end
-         | _ => match a with ARows _ _ | AHist _ _ => want_commit r v t a | _ => true end   (* refusing is fine; rows must be the right ones *)
-         end
-     if revdb_denotes r v then want_commit r v t a
-    else match (norm_base r (fst v), snd v) with
-         | (BBranch b, []) =>                         (* dirty branch: `db/branch` is the branch's working set *)
-           match branch_working r b with
-           | Some w => match assoc t (d_schema w) with
-                       | Some cols => ans_eqb a (ARows cols (rows_of t (d_data w)))
-                       | None => is_error a
-                       end
-           | None => is_error a
-           end
-         | _ => match a with ARows _ _ | AHist _ _ => want_commit r v t a | _ => true end   (* refusing is fine; rows must be the right ones *)
-         end
-i    if revdb_denotes r v then want_commit r v t a
-    else match (norm_base r (fst v), snd v) with
-         | (BBranch b, []) =>                         (* dirty branch: `db/branch` is the branch's working set *)
-           match branch_working r b with
-           | Some w => match assoc t (d_schema w) with
-                       | Some cols => ans_eqb a (ARows cols (rows_of t (d_data w)))
-                       | None => is_error a
-                       end
-           | None => is_error a
-           end
-         | _ => match a with ARows _ _ | AHist _ _ => want_commit r v t a | _ => true end   (* refusing is fine; rows must be the right ones *)
-         end
-s    if revdb_denotes r v then want_commit r v t a
-    else match (norm_base r (fst v), snd v) with
-         | (BBranch b, []) =>                         (* dirty branch: `db/branch` is the branch's working set *)
-           match branch_working r b with
-           | Some w => match assoc t (d_schema w) with
-                       | Some cols => ans_eqb a (ARows cols (rows_of t (d_data w)))
-                       | None => is_error a
-                       end
-           | None => is_error a
-           end
-         | _ => match a with ARows _ _ | AHist _ _ => want_commit r v t a | _ => true end   (* refusing is fine; rows must be the right ones *)
-         end
-     if revdb_denotes r v then want_commit r v t a
-    else match (norm_base r (fst v), snd v) with
-         | (BBranch b, []) =>                         (* dirty branch: `db/branch` is the branch's working set *)
-           match branch_working r b with
-           | Some w => match assoc t (d_schema w) with
-                       | Some cols => ans_eqb a (ARows cols (rows_of t (d_data w)))
-                       | None => is_error a
-                       end
-           | None => is_error a
-           end
-         | _ => match a with ARows _ _ | AHist _ _ => want_commit r v t a | _ => true end   (* refusing is fine; rows must be the right ones *)
-         end
-c    if revdb_denotes r v then want_commit r v t a
-    else match (norm_base r (fst v), snd v) with
-         | (BBranch b, []) =>                         (* dirty branch: `db/branch` is the branch's working set *)
-           match branch_working r b with
-           | Some w => match assoc t (d_schema w) with
-                       | Some cols => ans_eqb a (ARows cols (rows_of t (d_data w)))
-                       | None => is_error a
-                       end
-           | None => is_error a
-           end
-         | _ => match a with ARows _ _ | AHist _ _ => want_commit r v t a | _ => true end   (* refusing is fine; rows must be the right ones *)
-         end
-l    if revdb_denotes r v then want_commit r v t a
-    else match (norm_base r (fst v), snd v) with
-         | (BBranch b, []) =>                         (* dirty branch: `db/branch` is the branch's working set *)
-           match branch_working r b with
-           | Some w => match assoc t (d_schema w) with
-                       | Some cols => ans_eqb a (ARows cols (rows_of t (d_data w)))
-                       | None => is_error a
-                       end
-           | None => is_error a
-           end
-         | _ => match a with ARows _ _ | AHist _ _ => want_commit r v t a | _ => true end   (* refusing is fine; rows must be the right ones *)
-         end
-e    if revdb_denotes r v then want_commit r v t a
-    else match (norm_base r (fst v), snd v) with
-         | (BBranch b, []) =>                         (* dirty branch: `db/branch` is the branch's working set *)
-           match branch_working r b with
-           | Some w => match assoc t (d_schema w) with
-                       | Some cols => ans_eqb a (ARows cols (rows_of t (d_data w)))
-                       | None => is_error a
-                       end
-           | None => is_error a
-           end
-         | _ => match a with ARows _ _ | AHist _ _ => want_commit r v t a | _ => true end   (* refusing is fine; rows must be the right ones *)
-         end
-a    if revdb_denotes r v then want_commit r v t a
-    else match (norm_base r (fst v), snd v) with
-         | (BBranch b, []) =>                         (* dirty branch: `db/branch` is the branch's working set *)
-           match branch_working r b with
-           | Some w => match assoc t (d_schema w) with
-                       | Some cols => ans_eqb a (ARows cols (rows_of t (d_data w)))
-                       | None => is_error a
-                       end
-           | None => is_error a
-           end
-         | _ => match a with ARows _ _ | AHist _ _ => want_commit r v t a | _ => true end   (* refusing is fine; rows must be the right ones *)
-         end
-n    if revdb_denotes r v then want_commit r v t a
-    else match (norm_base r (fst v), snd v) with
-         | (BBranch b, []) =>                         (* dirty branch: `db/branch` is the branch's working set *)
-           match branch_working r b with
-           | Some w => match assoc t (d_schema w) with
-                       | Some cols => ans_eqb a (ARows cols (rows_of t (d_data w)))
-                       | None => is_error a
-                       end
-           | None => is_error a
-           end
-         | _ => match a with ARows _ _ | AHist _ _ => want_commit r v t a | _ => true end   (* refusing is fine; rows must be the right ones *)
-         end
-,    if revdb_denotes r v then want_commit r v t a
-    else match (norm_base r (fst v), snd v) with
-         | (BBranch b, []) =>                         (* dirty branch: `db/branch` is the branch's working set *)
-           match branch_working r b with
-           | Some w => match assoc t (d_schema w) with
-                       | Some cols => ans_eqb a (ARows cols (rows_of t (d_data w)))
-                       | None => is_error a
-                       end
-           | None => is_error a
-           end
-         | _ => match a with ARows _ _ | AHist _ _ => want_commit r v t a | _ => true end   (* refusing is fine; rows must be the right ones *)
-         end
-     if revdb_denotes r v then want_commit r v t a
-    else match (norm_base r (fst v), snd v) with
-         | (BBranch b, []) =>                         (* dirty branch: `db/branch` is the branch's working set *)
-           match branch_working r b with
-           | Some w => match assoc t (d_schema w) with
-                       | Some cols => ans_eqb a (ARows cols (rows_of t (d_data w)))
-                       | None => is_error a
-                       end
-           | None => is_error a
-           end
-         | _ => match a with ARows _ _ | AHist _ _ => want_commit r v t a | _ => true end   (* refusing is fine; rows must be the right ones *)
-         end
-o    if revdb_denotes r v then want_commit r v t a
-    else match (norm_base r (fst v), snd v) with
-         | (BBranch b, []) =>                         (* dirty branch: `db/branch` is the branch's working set *)
-           match branch_working r b with
-           | Some w => match assoc t (d_schema w) with
-                       | Some cols => ans_eqb a (ARows cols (rows_of t (d_data w)))
-                       | None => is_error a
-                       end
-           | None => is_error a
-           end
-         | _ => match a with ARows _ _ | AHist _ _ => want_commit r v t a | _ => true end   (* refusing is fine; rows must be the right ones *)
-         end
-t    if revdb_denotes r v then want_commit r v t a
-    else match (norm_base r (fst v), snd v) with
-         | (BBranch b, []) =>                         (* dirty branch: `db/branch` is the branch's working set *)
-           match branch_working r b with
-           | Some w => match assoc t (d_schema w) with
-                       | Some cols => ans_eqb a (ARows cols (rows_of t (d_data w)))
-                       | None => is_error a
-                       end
-           | None => is_error a
-           end
-         | _ => match a with ARows _ _ | AHist _ _ => want_commit r v t a | _ => true end   (* refusing is fine; rows must be the right ones *)
-         end
-h    if revdb_denotes r v then want_commit r v t a
-    else match (norm_base r (fst v), snd v) with
-         | (BBranch b, []) =>                         (* dirty branch: `db/branch` is the branch's working set *)
-           match branch_working r b with
-           | Some w => match assoc t (d_schema w) with
-                       | Some cols => ans_eqb a (ARows cols (rows_of t (d_data w)))
-                       | None => is_error a
-                       end
-           | None => is_error a
-           end
-         | _ => match a with ARows _ _ | AHist _ _ => want_commit r v t a | _ => true end   (* refusing is fine; rows must be the right ones *)
-         end
-e    if revdb_denotes r v then want_commit r v t a
-    else match (norm_base r (fst v), snd v) with
-         | (BBranch b, []) =>                         (* dirty branch: `db/branch` is the branch's working set *)
-           match branch_working r b with
-           | Some w => match assoc t (d_schema w) with
-                       | Some cols => ans_eqb a (ARows cols (rows_of t (d_data w)))
-                       | None => is_error a
-                       end
-           | None => is_error a
-           end
-         | _ => match a with ARows _ _ | AHist _ _ => want_commit r v t a | _ => true end   (* refusing is fine; rows must be the right ones *)
-         end
-r    if revdb_denotes r v then want_commit r v t a
-    else match (norm_base r (fst v), snd v) with
-         | (BBranch b, []) =>                         (* dirty branch: `db/branch` is the branch's working set *)
-           match branch_working r b with
-           | Some w => match assoc t (d_schema w) with
-                       | Some cols => ans_eqb a (ARows cols (rows_of t (d_data w)))
-                       | None => is_error a
-                       end
-           | None => is_error a
-           end
-         | _ => match a with ARows _ _ | AHist _ _ => want_commit r v t a | _ => true end   (* refusing is fine; rows must be the right ones *)
-         end
-w    if revdb_denotes r v then want_commit r v t a
-    else match (norm_base r (fst v), snd v) with
-         | (BBranch b, []) =>                         (* dirty branch: `db/branch` is the branch's working set *)
-           match branch_working r b with
-           | Some w => match assoc t (d_schema w) with
-                       | Some cols => ans_eqb a (ARows cols (rows_of t (d_data w)))
-                       | None => is_error a
-                       end
-           | None => is_error a
-           end
-         | _ => match a with ARows _ _ | AHist _ _ => want_commit r v t a | _ => true end   (* refusing is fine; rows must be the right ones *)
-         end
-i    if revdb_denotes r v then want_commit r v t a
-    else match (norm_base r (fst v), snd v) with
-         | (BBranch b, []) =>                         (* dirty branch: `db/branch` is the branch's working set *)
-           match branch_working r b with
-           | Some w => match assoc t (d_schema w) with
-                       | Some cols => ans_eqb a (ARows cols (rows_of t (d_data w)))
-                       | None => is_error a
-                       end
-           | None => is_error a
-           end
-         | _ => match a with ARows _ _ | AHist _ _ => want_commit r v t a | _ => true end   (* refusing is fine; rows must be the right ones *)
-         end
-s    if revdb_denotes r v then want_commit r v t a
-    else match (norm_base r (fst v), snd v) with
-         | (BBranch b, []) =>                         (* dirty branch: `db/branch` is the branch's working set *)
-           match branch_working r b with
-           | Some w => match assoc t (d_schema w) with
-                       | Some cols => ans_eqb a (ARows cols (rows_of t (d_data w)))
-                       | None => is_error a
-                       end
-           | None => is_error a
-           end
-         | _ => match a with ARows _ _ | AHist _ _ => want_commit r v t a | _ => true end   (* refusing is fine; rows must be the right ones *)
-         end
-e    if revdb_denotes r v then want_commit r v t a
-    else match (norm_base r (fst v), snd v) with
-         | (BBranch b, []) =>                         (* dirty branch: `db/branch` is the branch's working set *)
-           match branch_working r b with
-           | Some w => match assoc t (d_schema w) with
-                       | Some cols => ans_eqb a (ARows cols (rows_of t (d_data w)))
-                       | None => is_error a
-                       end
-           | None => is_error a
-           end
-         | _ => match a with ARows _ _ | AHist _ _ => want_commit r v t a | _ => true end   (* refusing is fine; rows must be the right ones *)
-         end
-     if revdb_denotes r v then want_commit r v t a
-    else match (norm_base r (fst v), snd v) with
-         | (BBranch b, []) =>                         (* dirty branch: `db/branch` is the branch's working set *)
-           match branch_working r b with
-           | Some w => match assoc t (d_schema w) with
-                       | Some cols => ans_eqb a (ARows cols (rows_of t (d_data w)))
-                       | None => is_error a
-                       end
-           | None => is_error a
-           end
-         | _ => match a with ARows _ _ | AHist _ _ => want_commit r v t a | _ => true end   (* refusing is fine; rows must be the right ones *)
-         end
-t    if revdb_denotes r v then want_commit r v t a
-    else match (norm_base r (fst v), snd v) with
-         | (BBranch b, []) =>                         (* dirty branch: `db/branch` is the branch's working set *)
-           match branch_working r b with
-           | Some w => match assoc t (d_schema w) with
-                       | Some cols => ans_eqb a (ARows cols (rows_of t (d_data w)))
-                       | None => is_error a
-                       end
-           | None => is_error a
-           end
-         | _ => match a with ARows _ _ | AHist _ _ => want_commit r v t a | _ => true end   (* refusing is fine; rows must be the right ones *)
-         end
-h    if revdb_denotes r v then want_commit r v t a
-    else match (norm_base r (fst v), snd v) with
-         | (BBranch b, []) =>                         (* dirty branch: `db/branch` is the branch's working set *)
-           match branch_working r b with
-           | Some w => match assoc t (d_schema w) with
-                       | Some cols => ans_eqb a (ARows cols (rows_of t (d_data w)))
-                       | None => is_error a
-                       end
-           | None => is_error a
-           end
-         | _ => match a with ARows _ _ | AHist _ _ => want_commit r v t a | _ => true end   (* refusing is fine; rows must be the right ones *)
-         end
-e    if revdb_denotes r v then want_commit r v t a
-    else match (norm_base r (fst v), snd v) with
-         | (BBranch b, []) =>                         (* dirty branch: `db/branch` is the branch's working set *)
-           match branch_working r b with
-           | Some w => match assoc t (d_schema w) with
-                       | Some cols => ans_eqb a (ARows cols (rows_of t (d_data w)))
-                       | None => is_error a
-                       end
-           | None => is_error a
-           end
-         | _ => match a with ARows _ _ | AHist _ _ => want_commit r v t a | _ => true end   (* refusing is fine; rows must be the right ones *)
-         end
-     if revdb_denotes r v then want_commit r v t a
-    else match (norm_base r (fst v), snd v) with
-         | (BBranch b, []) =>                         (* dirty branch: `db/branch` is the branch's working set *)
-           match branch_working r b with
-           | Some w => match assoc t (d_schema w) with
-                       | Some cols => ans_eqb a (ARows cols (rows_of t (d_data w)))
-                       | None => is_error a
-                       end
-           | None => is_error a
-           end
-         | _ => match a with ARows _ _ | AHist _ _ => want_commit r v t a | _ => true end   (* refusing is fine; rows must be the right ones *)
-         end
-p    if revdb_denotes r v then want_commit r v t a
-    else match (norm_base r (fst v), snd v) with
-         | (BBranch b, []) =>                         (* dirty branch: `db/branch` is the branch's working set *)
-           match branch_working r b with
-           | Some w => match assoc t (d_schema w) with
-                       | Some cols => ans_eqb a (ARows cols (rows_of t (d_data w)))
-                       | None => is_error a
-                       end
-           | None => is_error a
-           end
-         | _ => match a with ARows _ _ | AHist _ _ => want_commit r v t a | _ => true end   (* refusing is fine; rows must be the right ones *)
-         end
-r    if revdb_denotes r v then want_commit r v t a
-    else match (norm_base r (fst v), snd v) with
-         | (BBranch b, []) =>                         (* dirty branch: `db/branch` is the branch's working set *)
-           match branch_working r b with
-           | Some w => match assoc t (d_schema w) with
-                       | Some cols => ans_eqb a (ARows cols (rows_of t (d_data w)))
-                       | None => is_error a
-                       end
-           | None => is_error a
-           end
-         | _ => match a with ARows _ _ | AHist _ _ => want_commit r v t a | _ => true end   (* refusing is fine; rows must be the right ones *)
-         end
-o    if revdb_denotes r v then want_commit r v t a
-    else match (norm_base r (fst v), snd v) with
-         | (BBranch b, []) =>                         (* dirty branch: `db/branch` is the branch's working set *)
-           match branch_working r b with
-           | Some w => match assoc t (d_schema w) with
-                       | Some cols => ans_eqb a (ARows cols (rows_of t (d_data w)))
-                       | None => is_error a
-                       end
-           | None => is_error a
-           end
-         | _ => match a with ARows _ _ | AHist _ _ => want_commit r v t a | _ => true end   (* refusing is fine; rows must be the right ones *)
-         end
-p    if revdb_denotes r v then want_commit r v t a
-    else match (norm_base r (fst v), snd v) with
-         | (BBranch b, []) =>                         (* dirty branch: `db/branch` is the branch's working set *)
-           match branch_working r b with
-           | Some w => match assoc t (d_schema w) with
-                       | Some cols => ans_eqb a (ARows cols (rows_of t (d_data w)))
-                       | None => is_error a
-                       end
-           | None => is_error a
-           end
-         | _ => match a with ARows _ _ | AHist _ _ => want_commit r v t a | _ => true end   (* refusing is fine; rows must be the right ones *)
-         end
-e    if revdb_denotes r v then want_commit r v t a
-    else match (norm_base r (fst v), snd v) with
-         | (BBranch b, []) =>                         (* dirty branch: `db/branch` is the branch's working set *)
-           match branch_working r b with
-           | Some w => match assoc t (d_schema w) with
-                       | Some cols => ans_eqb a (ARows cols (rows_of t (d_data w)))
-                       | None => is_error a
-                       end
-           | None => is_error a
-           end
-         | _ => match a with ARows _ _ | AHist _ _ => want_commit r v t a | _ => true end   (* refusing is fine; rows must be the right ones *)
-         end
-r    if revdb_denotes r v then want_commit r v t a
-    else match (norm_base r (fst v), snd v) with
-         | (BBranch b, []) =>                         (* dirty branch: `db/branch` is the branch's working set *)
-           match branch_working r b with
-           | Some w => match assoc t (d_schema w) with
-                       | Some cols => ans_eqb a (ARows cols (rows_of t (d_data w)))
-                       | None => is_error a
-                       end
-           | None => is_error a
-           end
-         | _ => match a with ARows _ _ | AHist _ _ => want_commit r v t a | _ => true end   (* refusing is fine; rows must be the right ones *)
-         end
-t    if revdb_denotes r v then want_commit r v t a
-    else match (norm_base r (fst v), snd v) with
-         | (BBranch b, []) =>                         (* dirty branch: `db/branch` is the branch's working set *)
-           match branch_working r b with
-           | Some w => match assoc t (d_schema w) with
-                       | Some cols => ans_eqb a (ARows cols (rows_of t (d_data w)))
-                       | None => is_error a
-                       end
-           | None => is_error a
-           end
-         | _ => match a with ARows _ _ | AHist _ _ => want_commit r v t a | _ => true end   (* refusing is fine; rows must be the right ones *)
-         end
-y    if revdb_denotes r v then want_commit r v t a
-    else match (norm_base r (fst v), snd v) with
-         | (BBranch b, []) =>                         (* dirty branch: `db/branch` is the branch's working set *)
-           match branch_working r b with
-           | Some w => match assoc t (d_schema w) with
-                       | Some cols => ans_eqb a (ARows cols (rows_of t (d_data w)))
-                       | None => is_error a
-                       end
-           | None => is_error a
-           end
-         | _ => match a with ARows _ _ | AHist _ _ => want_commit r v t a | _ => true end   (* refusing is fine; rows must be the right ones *)
-         end
-     if revdb_denotes r v then want_commit r v t a
-    else match (norm_base r (fst v), snd v) with
-         | (BBranch b, []) =>                         (* dirty branch: `db/branch` is the branch's working set *)
-           match branch_working r b with
-           | Some w => match assoc t (d_schema w) with
-                       | Some cols => ans_eqb a (ARows cols (rows_of t (d_data w)))
-                       | None => is_error a
-                       end
-           | None => is_error a
-           end
-         | _ => match a with ARows _ _ | AHist _ _ => want_commit r v t a | _ => true end   (* refusing is fine; rows must be the right ones *)
-         end
-i    if revdb_denotes r v then want_commit r v t a
-    else match (norm_base r (fst v), snd v) with
-         | (BBranch b, []) =>                         (* dirty branch: `db/branch` is the branch's working set *)
-           match branch_working r b with
-           | Some w => match assoc t (d_schema w) with
-                       | Some cols => ans_eqb a (ARows cols (rows_of t (d_data w)))
-                       | None => is_error a
-                       end
-           | None => is_error a
-           end
-         | _ => match a with ARows _ _ | AHist _ _ => want_commit r v t a | _ => true end   (* refusing is fine; rows must be the right ones *)
-         end
-s    if revdb_denotes r v then want_commit r v t a
-    else match (norm_base r (fst v), snd v) with
-         | (BBranch b, []) =>                         (* dirty branch: `db/branch` is the branch's working set *)
-           match branch_working r b with
-           | Some w => match assoc t (d_schema w) with
-                       | Some cols => ans_eqb a (ARows cols (rows_of t (d_data w)))
-                       | None => is_error a
-                       end
-           | None => is_error a
-           end
-         | _ => match a with ARows _ _ | AHist _ _ => want_commit r v t a | _ => true end   (* refusing is fine; rows must be the right ones *)
-         end
-     if revdb_denotes r v then want_commit r v t a
-    else match (norm_base r (fst v), snd v) with
-         | (BBranch b, []) =>                         (* dirty branch: `db/branch` is the branch's working set *)
-           match branch_working r b with
-           | Some w => match assoc t (d_schema w) with
-                       | Some cols => ans_eqb a (ARows cols (rows_of t (d_data w)))
-                       | None => is_error a
-                       end
-           | None => is_error a
-           end
-         | _ => match a with ARows _ _ | AHist _ _ => want_commit r v t a | _ => true end   (* refusing is fine; rows must be the right ones *)
-         end
-s    if revdb_denotes r v then want_commit r v t a
-    else match (norm_base r (fst v), snd v) with
-         | (BBranch b, []) =>                         (* dirty branch: `db/branch` is the branch's working set *)
-           match branch_working r b with
-           | Some w => match assoc t (d_schema w) with
-                       | Some cols => ans_eqb a (ARows cols (rows_of t (d_data w)))
-                       | None => is_error a
-                       end
-           | None => is_error a
-           end
-         | _ => match a with ARows _ _ | AHist _ _ => want_commit r v t a | _ => true end   (* refusing is fine; rows must be the right ones *)
-         end
-i    if revdb_denotes r v then want_commit r v t a
-    else match (norm_base r (fst v), snd v) with
-         | (BBranch b, []) =>                         (* dirty branch: `db/branch` is the branch's working set *)
-           match branch_working r b with
-           | Some w => match assoc t (d_schema w) with
-                       | Some cols => ans_eqb a (ARows cols (rows_of t (d_data w)))
-                       | None => is_error a
-                       end
-           | None => is_error a
-           end
-         | _ => match a with ARows _ _ | AHist _ _ => want_commit r v t a | _ => true end   (* refusing is fine; rows must be the right ones *)
-         end
-l    if revdb_denotes r v then want_commit r v t a
-    else match (norm_base r (fst v), snd v) with
-         | (BBranch b, []) =>                         (* dirty branch: `db/branch` is the branch's working set *)
-           match branch_working r b with
-           | Some w => match assoc t (d_schema w) with
-                       | Some cols => ans_eqb a (ARows cols (rows_of t (d_data w)))
-                       | None => is_error a
-                       end
-           | None => is_error a
-           end
-         | _ => match a with ARows _ _ | AHist _ _ => want_commit r v t a | _ => true end   (* refusing is fine; rows must be the right ones *)
-         end
-e    if revdb_denotes r v then want_commit r v t a
-    else match (norm_base r (fst v), snd v) with
-         | (BBranch b, []) =>                         (* dirty branch: `db/branch` is the branch's working set *)
-           match branch_working r b with
-           | Some w => match assoc t (d_schema w) with
-                       | Some cols => ans_eqb a (ARows cols (rows_of t (d_data w)))
-                       | None => is_error a
-                       end
-           | None => is_error a
-           end
-         | _ => match a with ARows _ _ | AHist _ _ => want_commit r v t a | _ => true end   (* refusing is fine; rows must be the right ones *)
-         end
-n    if revdb_denotes r v then want_commit r v t a
-    else match (norm_base r (fst v), snd v) with
-         | (BBranch b, []) =>                         (* dirty branch: `db/branch` is the branch's working set *)
-           match branch_working r b with
-           | Some w => match assoc t (d_schema w) with
-                       | Some cols => ans_eqb a (ARows cols (rows_of t (d_data w)))
-                       | None => is_error a
-                       end
-           | None => is_error a
-           end
-         | _ => match a with ARows _ _ | AHist _ _ => want_commit r v t a | _ => true end   (* refusing is fine; rows must be the right ones *)
-         end
-t    if revdb_denotes r v then want_commit r v t a
-    else match (norm_base r (fst v), snd v) with
-         | (BBranch b, []) =>                         (* dirty branch: `db/branch` is the branch's working set *)
-           match branch_working r b with
-           | Some w => match assoc t (d_schema w) with
-                       | Some cols => ans_eqb a (ARows cols (rows_of t (d_data w)))
-                       | None => is_error a
-                       end
-           | None => is_error a
-           end
-         | _ => match a with ARows _ _ | AHist _ _ => want_commit r v t a | _ => true end   (* refusing is fine; rows must be the right ones *)
-         end
-.    if revdb_denotes r v then want_commit r v t a
-    else match (norm_base r (fst v), snd v) with
-         | (BBranch b, []) =>                         (* dirty branch: `db/branch` is the branch's working set *)
-           match branch_working r b with
-           | Some w => match assoc t (d_schema w) with
-                       | Some cols => ans_eqb a (ARows cols (rows_of t (d_data w)))
-                       | None => is_error a
-                       end
-           | None => is_error a
-           end
-         | _ => match a with ARows _ _ | AHist _ _ => want_commit r v t a | _ => true end   (* refusing is fine; rows must be the right ones *)
-         end
-     if revdb_denotes r v then want_commit r v t a
-    else match (norm_base r (fst v), snd v) with
-         | (BBranch b, []) =>                         (* dirty branch: `db/branch` is the branch's working set *)
-           match branch_working r b with
-           | Some w => match assoc t (d_schema w) with
-                       | Some cols => ans_eqb a (ARows cols (rows_of t (d_data w)))
-                       | None => is_error a
-                       end
-           | None => is_error a
-           end
-         | _ => match a with ARows _ _ | AHist _ _ => want_commit r v t a | _ => true end   (* refusing is fine; rows must be the right ones *)
-         end
-     if revdb_denotes r v then want_commit r v t a
-    else match (norm_base r (fst v), snd v) with
-         | (BBranch b, []) =>                         (* dirty branch: `db/branch` is the branch's working set *)
-           match branch_working r b with
-           | Some w => match assoc t (d_schema w) with
-                       | Some cols => ans_eqb a (ARows cols (rows_of t (d_data w)))
-                       | None => is_error a
-                       end
-           | None => is_error a
-           end
-         | _ => match a with ARows _ _ | AHist _ _ => want_commit r v t a | _ => true end   (* refusing is fine; rows must be the right ones *)
-         end
-T    if revdb_denotes r v then want_commit r v t a
-    else match (norm_base r (fst v), snd v) with
-         | (BBranch b, []) =>                         (* dirty branch: `db/branch` is the branch's working set *)
-           match branch_working r b with
-           | Some w => match assoc t (d_schema w) with
-                       | Some cols => ans_eqb a (ARows cols (rows_of t (d_data w)))
-                       | None => is_error a
-                       end
-           | None => is_error a
-           end
-         | _ => match a with ARows _ _ | AHist _ _ => want_commit r v t a | _ => true end   (* refusing is fine; rows must be the right ones *)
-         end
-h    if revdb_denotes r v then want_commit r v t a
-    else match (norm_base r (fst v), snd v) with
-         | (BBranch b, []) =>                         (* dirty branch: `db/branch` is the branch's working set *)
-           match branch_working r b with
-           | Some w => match assoc t (d_schema w) with
-                       | Some cols => ans_eqb a (ARows cols (rows_of t (d_data w)))
-                       | None => is_error a
-                       end
-           | None => is_error a
-           end
-         | _ => match a with ARows _ _ | AHist _ _ => want_commit r v t a | _ => true end   (* refusing is fine; rows must be the right ones *)
-         end
-e    if revdb_denotes r v then want_commit r v t a
-    else match (norm_base r (fst v), snd v) with
-         | (BBranch b, []) =>                         (* dirty branch: `db/branch` is the branch's working set *)
-           match branch_working r b with
-           | Some w => match assoc t (d_schema w) with
-                       | Some cols => ans_eqb a (ARows cols (rows_of t (d_data w)))
-                       | None => is_error a
-                       end
-           | None => is_error a
-           end
-         | _ => match a with ARows _ _ | AHist _ _ => want_commit r v t a | _ => true end   (* refusing is fine; rows must be the right ones *)
-         end
-
-    if revdb_denotes r v then want_commit r v t a
-    else match (norm_base r (fst v), snd v) with
-         | (BBranch b, []) =>                         (* dirty branch: `db/branch` is the branch's working set *)
-           match branch_working r b with
-           | Some w => match assoc t (d_schema w) with
-                       | Some cols => ans_eqb a (ARows cols (rows_of t (d_data w)))
-                       | None => is_error a
-                       end
-           | None => is_error a
-           end
-         | _ => match a with ARows _ _ | AHist _ _ => want_commit r v t a | _ => true end   (* refusing is fine; rows must be the right ones *)
-         end
-     if revdb_denotes r v then want_commit r v t a
-    else match (norm_base r (fst v), snd v) with
-         | (BBranch b, []) =>                         (* dirty branch: `db/branch` is the branch's working set *)
-           match branch_working r b with
-           | Some w => match assoc t (d_schema w) with
-                       | Some cols => ans_eqb a (ARows cols (rows_of t (d_data w)))
-                       | None => is_error a
-                       end
-           | None => is_error a
-           end
-         | _ => match a with ARows _ _ | AHist _ _ => want_commit r v t a | _ => true end   (* refusing is fine; rows must be the right ones *)
-         end
-     if revdb_denotes r v then want_commit r v t a
-    else match (norm_base r (fst v), snd v) with
-         | (BBranch b, []) =>                         (* dirty branch: `db/branch` is the branch's working set *)
-           match branch_working r b with
-           | Some w => match assoc t (d_schema w) with
-                       | Some cols => ans_eqb a (ARows cols (rows_of t (d_data w)))
-                       | None => is_error a
-                       end
-           | None => is_error a
-           end
-         | _ => match a with ARows _ _ | AHist _ _ => want_commit r v t a | _ => true end   (* refusing is fine; rows must be the right ones *)
-         end
-     if revdb_denotes r v then want_commit r v t a
-    else match (norm_base r (fst v), snd v) with
-         | (BBranch b, []) =>                         (* dirty branch: `db/branch` is the branch's working set *)
-           match branch_working r b with
-           | Some w => match assoc t (d_schema w) with
-                       | Some cols => ans_eqb a (ARows cols (rows_of t (d_data w)))
-                       | None => is_error a
-                       end
-           | None => is_error a
-           end
-         | _ => match a with ARows _ _ | AHist _ _ => want_commit r v t a | _ => true end   (* refusing is fine; rows must be the right ones *)
-         end
-h    if revdb_denotes r v then want_commit r v t a
-    else match (norm_base r (fst v), snd v) with
-         | (BBranch b, []) =>                         (* dirty branch: `db/branch` is the branch's working set *)
-           match branch_working r b with
-           | Some w => match assoc t (d_schema w) with
-                       | Some cols => ans_eqb a (ARows cols (rows_of t (d_data w)))
-                       | None => is_error a
-                       end
-           | None => is_error a
-           end
-         | _ => match a with ARows _ _ | AHist _ _ => want_commit r v t a | _ => true end   (* refusing is fine; rows must be the right ones *)
-         end
-i    if revdb_denotes r v then want_commit r v t a
-    else match (norm_base r (fst v), snd v) with
-         | (BBranch b, []) =>                         (* dirty branch: `db/branch` is the branch's working set *)
-           match branch_working r b with
-           | Some w => match assoc t (d_schema w) with
-                       | Some cols => ans_eqb a (ARows cols (rows_of t (d_data w)))
-                       | None => is_error a
-                       end
-           | None => is_error a
-           end
-         | _ => match a with ARows _ _ | AHist _ _ => want_commit r v t a | _ => true end   (* refusing is fine; rows must be the right ones *)
-         end
-s    if revdb_denotes r v then want_commit r v t a
-    else match (norm_base r (fst v), snd v) with
-         | (BBranch b, []) =>                         (* dirty branch: `db/branch` is the branch's working set *)
-           match branch_working r b with
-           | Some w => match assoc t (d_schema w) with
-                       | Some cols => ans_eqb a (ARows cols (rows_of t (d_data w)))
-                       | None => is_error a
-                       end
-           | None => is_error a
-           end
-         | _ => match a with ARows _ _ | AHist _ _ => want_commit r v t a | _ => true end   (* refusing is fine; rows must be the right ones *)
-         end
-t    if revdb_denotes r v then want_commit r v t a
-    else match (norm_base r (fst v), snd v) with
-         | (BBranch b, []) =>                         (* dirty branch: `db/branch` is the branch's working set *)
-           match branch_working r b with
-           | Some w => match assoc t (d_schema w) with
-                       | Some cols => ans_eqb a (ARows cols (rows_of t (d_data w)))
-                       | None => is_error a
-                       end
-           | None => is_error a
-           end
-         | _ => match a with ARows _ _ | AHist _ _ => want_commit r v t a | _ => true end   (* refusing is fine; rows must be the right ones *)
-         end
-o    if revdb_denotes r v then want_commit r v t a
-    else match (norm_base r (fst v), snd v) with
-         | (BBranch b, []) =>                         (* dirty branch: `db/branch` is the branch's working set *)
-           match branch_working r b with
-           | Some w => match assoc t (d_schema w) with
-                       | Some cols => ans_eqb a (ARows cols (rows_of t (d_data w)))
-                       | None => is_error a
-                       end
-           | None => is_error a
-           end
-         | _ => match a with ARows _ _ | AHist _ _ => want_commit r v t a | _ => true end   (* refusing is fine; rows must be the right ones *)
-         end
-r    if revdb_denotes r v then want_commit r v t a
-    else match (norm_base r (fst v), snd v) with
-         | (BBranch b, []) =>                         (* dirty branch: `db/branch` is the branch's working set *)
-           match branch_working r b with
-           | Some w => match assoc t (d_schema w) with
-                       | Some cols => ans_eqb a (ARows cols (rows_of t (d_data w)))
-                       | None => is_error a
-                       end
-           | None => is_error a
-           end
-         | _ => match a with ARows _ _ | AHist _ _ => want_commit r v t a | _ => true end   (* refusing is fine; rows must be the right ones *)
-         end
-y    if revdb_denotes r v then want_commit r v t a
-    else match (norm_base r (fst v), snd v) with
-         | (BBranch b, []) =>                         (* dirty branch: `db/branch` is the branch's working set *)
-           match branch_working r b with
-           | Some w => match assoc t (d_schema w) with
-                       | Some cols => ans_eqb a (ARows cols (rows_of t (d_data w)))
-                       | None => is_error a
-                       end
-           | None => is_error a
-           end
-         | _ => match a with ARows _ _ | AHist _ _ => want_commit r v t a | _ => true end   (* refusing is fine; rows must be the right ones *)
-         end
-     if revdb_denotes r v then want_commit r v t a
-    else match (norm_base r (fst v), snd v) with
-         | (BBranch b, []) =>                         (* dirty branch: `db/branch` is the branch's working set *)
-           match branch_working r b with
-           | Some w => match assoc t (d_schema w) with
-                       | Some cols => ans_eqb a (ARows cols (rows_of t (d_data w)))
-                       | None => is_error a
-                       end
-           | None => is_error a
-           end
-         | _ => match a with ARows _ _ | AHist _ _ => want_commit r v t a | _ => true end   (* refusing is fine; rows must be the right ones *)
-         end
-t    if revdb_denotes r v then want_commit r v t a
-    else match (norm_base r (fst v), snd v) with
-         | (BBranch b, []) =>                         (* dirty branch: `db/branch` is the branch's working set *)
-           match branch_working r b with
-           | Some w => match assoc t (d_schema w) with
-                       | Some cols => ans_eqb a (ARows cols (rows_of t (d_data w)))
-                       | None => is_error a
-                       end
-           | None => is_error a
-           end
-         | _ => match a with ARows _ _ | AHist _ _ => want_commit r v t a | _ => true end   (* refusing is fine; rows must be the right ones *)
-         end
-a    if revdb_denotes r v then want_commit r v t a
-    else match (norm_base r (fst v), snd v) with
-         | (BBranch b, []) =>                         (* dirty branch: `db/branch` is the branch's working set *)
-           match branch_working r b with
-           | Some w => match assoc t (d_schema w) with
-                       | Some cols => ans_eqb a (ARows cols (rows_of t (d_data w)))
-                       | None => is_error a
-                       end
-           | None => is_error a
-           end
-         | _ => match a with ARows _ _ | AHist _ _ => want_commit r v t a | _ => true end   (* refusing is fine; rows must be the right ones *)
-         end
-b    if revdb_denotes r v then want_commit r v t a
-    else match (norm_base r (fst v), snd v) with
-         | (BBranch b, []) =>                         (* dirty branch: `db/branch` is the branch's working set *)
-           match branch_working r b with
-           | Some w => match assoc t (d_schema w) with
-                       | Some cols => ans_eqb a (ARows cols (rows_of t (d_data w)))
-                       | None => is_error a
-                       end
-           | None => is_error a
-           end
-         | _ => match a with ARows _ _ | AHist _ _ => want_commit r v t a | _ => true end   (* refusing is fine; rows must be the right ones *)
-         end
-l    if revdb_denotes r v then want_commit r v t a
-    else match (norm_base r (fst v), snd v) with
-         | (BBranch b, []) =>                         (* dirty branch: `db/branch` is the branch's working set *)
-           match branch_working r b with
-           | Some w => match assoc t (d_schema w) with
-                       | Some cols => ans_eqb a (ARows cols (rows_of t (d_data w)))
-                       | None => is_error a
-                       end
-           | None => is_error a
-           end
-         | _ => match a with ARows _ _ | AHist _ _ => want_commit r v t a | _ => true end   (* refusing is fine; rows must be the right ones *)
-         end
-e    if revdb_denotes r v then want_commit r v t a
-    else match (norm_base r (fst v), snd v) with
-         | (BBranch b, []) =>                         (* dirty branch: `db/branch` is the branch's working set *)
-           match branch_working r b with
-           | Some w => match assoc t (d_schema w) with
-                       | Some cols => ans_eqb a (ARows cols (rows_of t (d_data w)))
-                       | None => is_error a
-                       end
-           | None => is_error a
-           end
-         | _ => match a with ARows _ _ | AHist _ _ => want_commit r v t a | _ => true end   (* refusing is fine; rows must be the right ones *)
-         end
-     if revdb_denotes r v then want_commit r v t a
-    else match (norm_base r (fst v), snd v) with
-         | (BBranch b, []) =>                         (* dirty branch: `db/branch` is the branch's working set *)
-           match branch_working r b with
-           | Some w => match assoc t (d_schema w) with
-                       | Some cols => ans_eqb a (ARows cols (rows_of t (d_data w)))
-                       | None => is_error a
-                       end
-           | None => is_error a
-           end
-         | _ => match a with ARows _ _ | AHist _ _ => want_commit r v t a | _ => true end   (* refusing is fine; rows must be the right ones *)
-         end
-i    if revdb_denotes r v then want_commit r v t a
-    else match (norm_base r (fst v), snd v) with
-         | (BBranch b, []) =>                         (* dirty branch: `db/branch` is the branch's working set *)
-           match branch_working r b with
-           | Some w => match assoc t (d_schema w) with
-                       | Some cols => ans_eqb a (ARows cols (rows_of t (d_data w)))
-                       | None => is_error a
-                       end
-           | None => is_error a
-           end
-         | _ => match a with ARows _ _ | AHist _ _ => want_commit r v t a | _ => true end   (* refusing is fine; rows must be the right ones *)
-         end
-s    if revdb_denotes r v then want_commit r v t a
-    else match (norm_base r (fst v), snd v) with
-         | (BBranch b, []) =>                         (* dirty branch: `db/branch` is the branch's working set *)
-           match branch_working r b with
-           | Some w => match assoc t (d_schema w) with
-                       | Some cols => ans_eqb a (ARows cols (rows_of t (d_data w)))
-                       | None => is_error a
-                       end
-           | None => is_error a
-           end
-         | _ => match a with ARows _ _ | AHist _ _ => want_commit r v t a | _ => true end   (* refusing is fine; rows must be the right ones *)
-         end
-     if revdb_denotes r v then want_commit r v t a
-    else match (norm_base r (fst v), snd v) with
-         | (BBranch b, []) =>                         (* dirty branch: `db/branch` is the branch's working set *)
-           match branch_working r b with
-           | Some w => match assoc t (d_schema w) with
-                       | Some cols => ans_eqb a (ARows cols (rows_of t (d_data w)))
-                       | None => is_error a
-                       end
-           | None => is_error a
-           end
-         | _ => match a with ARows _ _ | AHist _ _ => want_commit r v t a | _ => true end   (* refusing is fine; rows must be the right ones *)
-         end
-r    if revdb_denotes r v then want_commit r v t a
-    else match (norm_base r (fst v), snd v) with
-         | (BBranch b, []) =>                         (* dirty branch: `db/branch` is the branch's working set *)
-           match branch_working r b with
-           | Some w => match assoc t (d_schema w) with
-                       | Some cols => ans_eqb a (ARows cols (rows_of t (d_data w)))
-                       | None => is_error a
-                       end
-           | None => is_error a
-           end
-         | _ => match a with ARows _ _ | AHist _ _ => want_commit r v t a | _ => true end   (* refusing is fine; rows must be the right ones *)
-         end
-e    if revdb_denotes r v then want_commit r v t a
-    else match (norm_base r (fst v), snd v) with
-         | (BBranch b, []) =>                         (* dirty branch: `db/branch` is the branch's working set *)
-           match branch_working r b with
-           | Some w => match assoc t (d_schema w) with
-                       | Some cols => ans_eqb a (ARows cols (rows_of t (d_data w)))
-                       | None => is_error a
-                       end
-           | None => is_error a
-           end
-         | _ => match a with ARows _ _ | AHist _ _ => want_commit r v t a | _ => true end   (* refusing is fine; rows must be the right ones *)
-         end
-a    if revdb_denotes r v then want_commit r v t a
-    else match (norm_base r (fst v), snd v) with
-         | (BBranch b, []) =>                         (* dirty branch: `db/branch` is the branch's working set *)
-           match branch_working r b with
-           | Some w => match assoc t (d_schema w) with
-                       | Some cols => ans_eqb a (ARows cols (rows_of t (d_data w)))
-                       | None => is_error a
-                       end
-           | None => is_error a
-           end
-         | _ => match a with ARows _ _ | AHist _ _ => want_commit r v t a | _ => true end   (* refusing is fine; rows must be the right ones *)
-         end
-d    if revdb_denotes r v then want_commit r v t a
-    else match (norm_base r (fst v), snd v) with
-         | (BBranch b, []) =>                         (* dirty branch: `db/branch` is the branch's working set *)
-           match branch_working r b with
-           | Some w => match assoc t (d_schema w) with
-                       | Some cols => ans_eqb a (ARows cols (rows_of t (d_data w)))
-                       | None => is_error a
-                       end
-           | None => is_error a
-           end
-         | _ => match a with ARows _ _ | AHist _ _ => want_commit r v t a | _ => true end   (* refusing is fine; rows must be the right ones *)
-         end
-     if revdb_denotes r v then want_commit r v t a
-    else match (norm_base r (fst v), snd v) with
-         | (BBranch b, []) =>                         (* dirty branch: `db/branch` is the branch's working set *)
-           match branch_working r b with
-           | Some w => match assoc t (d_schema w) with
-                       | Some cols => ans_eqb a (ARows cols (rows_of t (d_data w)))
-                       | None => is_error a
-                       end
-           | None => is_error a
-           end
-         | _ => match a with ARows _ _ | AHist _ _ => want_commit r v t a | _ => true end   (* refusing is fine; rows must be the right ones *)
-         end
-t    if revdb_denotes r v then want_commit r v t a
-    else match (norm_base r (fst v), snd v) with
-         | (BBranch b, []) =>                         (* dirty branch: `db/branch` is the branch's working set *)
-           match branch_working r b with
-           | Some w => match assoc t (d_schema w) with
-                       | Some cols => ans_eqb a (ARows cols (rows_of t (d_data w)))
-                       | None => is_error a
-                       end
-           | None => is_error a
-           end
-         | _ => match a with ARows _ _ | AHist _ _ => want_commit r v t a | _ => true end   (* refusing is fine; rows must be the right ones *)
-         end
-h    if revdb_denotes r v then want_commit r v t a
-    else match (norm_base r (fst v), snd v) with
-         | (BBranch b, []) =>                         (* dirty branch: `db/branch` is the branch's working set *)
-           match branch_working r b with
-           | Some w => match assoc t (d_schema w) with
-                       | Some cols => ans_eqb a (ARows cols (rows_of t (d_data w)))
-                       | None => is_error a
-                       end
-           | None => is_error a
-           end
-         | _ => match a with ARows _ _ | AHist _ _ => want_commit r v t a | _ => true end   (* refusing is fine; rows must be the right ones *)
-         end
-r    if revdb_denotes r v then want_commit r v t a
-    else match (norm_base r (fst v), snd v) with
-         | (BBranch b, []) =>                         (* dirty branch: `db/branch` is the branch's working set *)
-           match branch_working r b with
-           | Some w => match assoc t (d_schema w) with
-                       | Some cols => ans_eqb a (ARows cols (rows_of t (d_data w)))
-                       | None => is_error a
-                       end
-           | None => is_error a
-           end
-         | _ => match a with ARows _ _ | AHist _ _ => want_commit r v t a | _ => true end   (* refusing is fine; rows must be the right ones *)
-         end
-o    if revdb_denotes r v then want_commit r v t a
-    else match (norm_base r (fst v), snd v) with
-         | (BBranch b, []) =>                         (* dirty branch: `db/branch` is the branch's working set *)
-           match branch_working r b with
-           | Some w => match assoc t (d_schema w) with
-                       | Some cols => ans_eqb a (ARows cols (rows_of t (d_data w)))
-                       | None => is_error a
-                       end
-           | None => is_error a
-           end
-         | _ => match a with ARows _ _ | AHist _ _ => want_commit r v t a | _ => true end   (* refusing is fine; rows must be the right ones *)
-         end
-u    if revdb_denotes r v then want_commit r v t a
-    else match (norm_base r (fst v), snd v) with
-         | (BBranch b, []) =>                         (* dirty branch: `db/branch` is the branch's working set *)
-           match branch_working r b with
-           | Some w => match assoc t (d_schema w) with
-                       | Some cols => ans_eqb a (ARows cols (rows_of t (d_data w)))
-                       | None => is_error a
-                       end
-           | None => is_error a
-           end
-         | _ => match a with ARows _ _ | AHist _ _ => want_commit r v t a | _ => true end   (* refusing is fine; rows must be the right ones *)
-         end
-g    if revdb_denotes r v then want_commit r v t a
-    else match (norm_base r (fst v), snd v) with
-         | (BBranch b, []) =>                         (* dirty branch: `db/branch` is the branch's working set *)
-           match branch_working r b with
-           | Some w => match assoc t (d_schema w) with
-                       | Some cols => ans_eqb a (ARows cols (rows_of t (d_data w)))
-                       | None => is_error a
-                       end
-           | None => is_error a
-           end
-         | _ => match a with ARows _ _ | AHist _ _ => want_commit r v t a | _ => true end   (* refusing is fine; rows must be the right ones *)
-         end
-h    if revdb_denotes r v then want_commit r v t a
-    else match (norm_base r (fst v), snd v) with
-         | (BBranch b, []) =>                         (* dirty branch: `db/branch` is the branch's working set *)
-           match branch_working r b with
-           | Some w => match assoc t (d_schema w) with
-                       | Some cols => ans_eqb a (ARows cols (rows_of t (d_data w)))
-                       | None => is_error a
-                       end
-           | None => is_error a
-           end
-         | _ => match a with ARows _ _ | AHist _ _ => want_commit r v t a | _ => true end   (* refusing is fine; rows must be the right ones *)
-         end
-     if revdb_denotes r v then want_commit r v t a
-    else match (norm_base r (fst v), snd v) with
-         | (BBranch b, []) =>                         (* dirty branch: `db/branch` is the branch's working set *)
-           match branch_working r b with
-           | Some w => match assoc t (d_schema w) with
-                       | Some cols => ans_eqb a (ARows cols (rows_of t (d_data w)))
-                       | None => is_error a
-                       end
-           | None => is_error a
-           end
-         | _ => match a with ARows _ _ | AHist _ _ => want_commit r v t a | _ => true end   (* refusing is fine; rows must be the right ones *)
-         end
-t    if revdb_denotes r v then want_commit r v t a
-    else match (norm_base r (fst v), snd v) with
-         | (BBranch b, []) =>                         (* dirty branch: `db/branch` is the branch's working set *)
-           match branch_working r b with
-           | Some w => match assoc t (d_schema w) with
-                       | Some cols => ans_eqb a (ARows cols (rows_of t (d_data w)))
-                       | None => is_error a
-                       end
-           | None => is_error a
-           end
-         | _ => match a with ARows _ _ | AHist _ _ => want_commit r v t a | _ => true end   (* refusing is fine; rows must be the right ones *)
-         end
-h    if revdb_denotes r v then want_commit r v t a
-    else match (norm_base r (fst v), snd v) with
-         | (BBranch b, []) =>                         (* dirty branch: `db/branch` is the branch's working set *)
-           match branch_working r b with
-           | Some w => match assoc t (d_schema w) with
-                       | Some cols => ans_eqb a (ARows cols (rows_of t (d_data w)))
-                       | None => is_error a
-                       end
-           | None => is_error a
-           end
-         | _ => match a with ARows _ _ | AHist _ _ => want_commit r v t a | _ => true end   (* refusing is fine; rows must be the right ones *)
-         end
-e    if revdb_denotes r v then want_commit r v t a
-    else match (norm_base r (fst v), snd v) with
-         | (BBranch b, []) =>                         (* dirty branch: `db/branch` is the branch's working set *)
-           match branch_working r b with
-           | Some w => match assoc t (d_schema w) with
-                       | Some cols => ans_eqb a (ARows cols (rows_of t (d_data w)))
-                       | None => is_error a
-                       end
-           | None => is_error a
-           end
-         | _ => match a with ARows _ _ | AHist _ _ => want_commit r v t a | _ => true end   (* refusing is fine; rows must be the right ones *)
-         end
-     if revdb_denotes r v then want_commit r v t a
-    else match (norm_base r (fst v), snd v) with
-         | (BBranch b, []) =>                         (* dirty branch: `db/branch` is the branch's working set *)
-           match branch_working r b with
-           | Some w => match assoc t (d_schema w) with
-                       | Some cols => ans_eqb a (ARows cols (rows_of t (d_data w)))
-                       | None => is_error a
-                       end
-           | None => is_error a
-           end
-         | _ => match a with ARows _ _ | AHist _ _ => want_commit r v t a | _ => true end   (* refusing is fine; rows must be the right ones *)
-         end
-c    if revdb_denotes r v then want_commit r v t a
-    else match (norm_base r (fst v), snd v) with
-         | (BBranch b, []) =>                         (* dirty branch: `db/branch` is the branch's working set *)
-           match branch_working r b with
-           | Some w => match assoc t (d_schema w) with
-                       | Some cols => ans_eqb a (ARows cols (rows_of t (d_data w)))
-                       | None => is_error a
-                       end
-           | None => is_error a
-           end
-         | _ => match a with ARows _ _ | AHist _ _ => want_commit r v t a | _ => true end   (* refusing is fine; rows must be the right ones *)
-         end
-u    if revdb_denotes r v then want_commit r v t a
-    else match (norm_base r (fst v), snd v) with
-         | (BBranch b, []) =>                         (* dirty branch: `db/branch` is the branch's working set *)
-           match branch_working r b with
-           | Some w => match assoc t (d_schema w) with
-                       | Some cols => ans_eqb a (ARows cols (rows_of t (d_data w)))
-                       | None => is_error a
-                       end
-           | None => is_error a
-           end
-         | _ => match a with ARows _ _ | AHist _ _ => want_commit r v t a | _ => true end   (* refusing is fine; rows must be the right ones *)
-         end
-r    if revdb_denotes r v then want_commit r v t a
-    else match (norm_base r (fst v), snd v) with
-         | (BBranch b, []) =>                         (* dirty branch: `db/branch` is the branch's working set *)
-           match branch_working r b with
-           | Some w => match assoc t (d_schema w) with
-                       | Some cols => ans_eqb a (ARows cols (rows_of t (d_data w)))
-                       | None => is_error a
-                       end
-           | None => is_error a
-           end
-         | _ => match a with ARows _ _ | AHist _ _ => want_commit r v t a | _ => true end   (* refusing is fine; rows must be the right ones *)
-         end
-r    if revdb_denotes r v then want_commit r v t a
-    else match (norm_base r (fst v), snd v) with
-         | (BBranch b, []) =>                         (* dirty branch: `db/branch` is the branch's working set *)
-           match branch_working r b with
-           | Some w => match assoc t (d_schema w) with
-                       | Some cols => ans_eqb a (ARows cols (rows_of t (d_data w)))
-                       | None => is_error a
-                       end
-           | None => is_error a
-           end
-         | _ => match a with ARows _ _ | AHist _ _ => want_commit r v t a | _ => true end   (* refusing is fine; rows must be the right ones *)
-         end
-e    if revdb_denotes r v then want_commit r v t a
-    else match (norm_base r (fst v), snd v) with
-         | (BBranch b, []) =>                         (* dirty branch: `db/branch` is the branch's working set *)
-           match branch_working r b with
-           | Some w => match assoc t (d_schema w) with
-                       | Some cols => ans_eqb a (ARows cols (rows_of t (d_data w)))
-                       | None => is_error a
-                       end
-           | None => is_error a
-           end
-         | _ => match a with ARows _ _ | AHist _ _ => want_commit r v t a | _ => true end   (* refusing is fine; rows must be the right ones *)
-         end
-n    if revdb_denotes r v then want_commit r v t a
-    else match (norm_base r (fst v), snd v) with
-         | (BBranch b, []) =>                         (* dirty branch: `db/branch` is the branch's working set *)
-           match branch_working r b with
-           | Some w => match assoc t (d_schema w) with
-                       | Some cols => ans_eqb a (ARows cols (rows_of t (d_data w)))
-                       | None => is_error a
-                       end
-           | None => is_error a
-           end
-         | _ => match a with ARows _ _ | AHist _ _ => want_commit r v t a | _ => true end   (* refusing is fine; rows must be the right ones *)
-         end
-t    if revdb_denotes r v then want_commit r v t a
-    else match (norm_base r (fst v), snd v) with
-         | (BBranch b, []) =>                         (* dirty branch: `db/branch` is the branch's working set *)
-           match branch_working r b with
-           | Some w => match assoc t (d_schema w) with
-                       | Some cols => ans_eqb a (ARows cols (rows_of t (d_data w)))
-                       | None => is_error a
-                       end
-           | None => is_error a
-           end
-         | _ => match a with ARows _ _ | AHist _ _ => want_commit r v t a | _ => true end   (* refusing is fine; rows must be the right ones *)
-         end
-     if revdb_denotes r v then want_commit r v t a
-    else match (norm_base r (fst v), snd v) with
-         | (BBranch b, []) =>                         (* dirty branch: `db/branch` is the branch's working set *)
-           match branch_working r b with
-           | Some w => match assoc t (d_schema w) with
-                       | Some cols => ans_eqb a (ARows cols (rows_of t (d_data w)))
-                       | None => is_error a
-                       end
-           | None => is_error a
-           end
-         | _ => match a with ARows _ _ | AHist _ _ => want_commit r v t a | _ => true end   (* refusing is fine; rows must be the right ones *)
-         end
-s    if revdb_denotes r v then want_commit r v t a
-    else match (norm_base r (fst v), snd v) with
-         | (BBranch b, []) =>                         (* dirty branch: `db/branch` is the branch's working set *)
-           match branch_working r b with
-           | Some w => match assoc t (d_schema w) with
-                       | Some cols => ans_eqb a (ARows cols (rows_of t (d_data w)))
-                       | None => is_error a
-                       end
-           | None => is_error a
-           end
-         | _ => match a with ARows _ _ | AHist _ _ => want_commit r v t a | _ => true end   (* refusing is fine; rows must be the right ones *)
-         end
-c    if revdb_denotes r v then want_commit r v t a
-    else match (norm_base r (fst v), snd v) with
-         | (BBranch b, []) =>                         (* dirty branch: `db/branch` is the branch's working set *)
-           match branch_working r b with
-           | Some w => match assoc t (d_schema w) with
-                       | Some cols => ans_eqb a (ARows cols (rows_of t (d_data w)))
-                       | None => is_error a
-                       end
-           | None => is_error a
-           end
-         | _ => match a with ARows _ _ | AHist _ _ => want_commit r v t a | _ => true end   (* refusing is fine; rows must be the right ones *)
-         end
-h    if revdb_denotes r v then want_commit r v t a
-    else match (norm_base r (fst v), snd v) with
-         | (BBranch b, []) =>                         (* dirty branch: `db/branch` is the branch's working set *)
-           match branch_working r b with
-           | Some w => match assoc t (d_schema w) with
-                       | Some cols => ans_eqb a (ARows cols (rows_of t (d_data w)))
-                       | None => is_error a
-                       end
-           | None => is_error a
-           end
-         | _ => match a with ARows _ _ | AHist _ _ => want_commit r v t a | _ => true end   (* refusing is fine; rows must be the right ones *)
-         end
-e    if revdb_denotes r v then want_commit r v t a
-    else match (norm_base r (fst v), snd v) with
-         | (BBranch b, []) =>                         (* dirty branch: `db/branch` is the branch's working set *)
-           match branch_working r b with
-           | Some w => match assoc t (d_schema w) with
-                       | Some cols => ans_eqb a (ARows cols (rows_of t (d_data w)))
-                       | None => is_error a
-                       end
-           | None => is_error a
-           end
-         | _ => match a with ARows _ _ | AHist _ _ => want_commit r v t a | _ => true end   (* refusing is fine; rows must be the right ones *)
-         end
-m    if revdb_denotes r v then want_commit r v t a
-    else match (norm_base r (fst v), snd v) with
-         | (BBranch b, []) =>                         (* dirty branch: `db/branch` is the branch's working set *)
-           match branch_working r b with
-           | Some w => match assoc t (d_schema w) with
-                       | Some cols => ans_eqb a (ARows cols (rows_of t (d_data w)))
-                       | None => is_error a
-                       end
-           | None => is_error a
-           end
-         | _ => match a with ARows _ _ | AHist _ _ => want_commit r v t a | _ => true end   (* refusing is fine; rows must be the right ones *)
-         end
-a    if revdb_denotes r v then want_commit r v t a
-    else match (norm_base r (fst v), snd v) with
-         | (BBranch b, []) =>                         (* dirty branch: `db/branch` is the branch's working set *)
-           match branch_working r b with
-           | Some w => match assoc t (d_schema w) with
-                       | Some cols => ans_eqb a (ARows cols (rows_of t (d_data w)))
-                       | None => is_error a
-                       end
-           | None => is_error a
-           end
-         | _ => match a with ARows _ _ | AHist _ _ => want_commit r v t a | _ => true end   (* refusing is fine; rows must be the right ones *)
-         end
-     if revdb_denotes r v then want_commit r v t a
-    else match (norm_base r (fst v), snd v) with
-         | (BBranch b, []) =>                         (* dirty branch: `db/branch` is the branch's working set *)
-           match branch_working r b with
-           | Some w => match assoc t (d_schema w) with
-                       | Some cols => ans_eqb a (ARows cols (rows_of t (d_data w)))
-                       | None => is_error a
-                       end
-           | None => is_error a
-           end
-         | _ => match a with ARows _ _ | AHist _ _ => want_commit r v t a | _ => true end   (* refusing is fine; rows must be the right ones *)
-         end
-o    if revdb_denotes r v then want_commit r v t a
-    else match (norm_base r (fst v), snd v) with
-         | (BBranch b, []) =>                         (* dirty branch: `db/branch` is the branch's working set *)
-           match branch_working r b with
-           | Some w => match assoc t (d_schema w) with
-                       | Some cols => ans_eqb a (ARows cols (rows_of t (d_data w)))
-                       | None => is_error a
-                       end
-           | None => is_error a
-           end
-         | _ => match a with ARows _ _ | AHist _ _ => want_commit r v t a | _ => true end   (* refusing is fine; rows must be the right ones *)
-         end
-f    if revdb_denotes r v then want_commit r v t a
-    else match (norm_base r (fst v), snd v) with
-         | (BBranch b, []) =>                         (* dirty branch: `db/branch` is the branch's working set *)
-           match branch_working r b with
-           | Some w => match assoc t (d_schema w) with
-                       | Some cols => ans_eqb a (ARows cols (rows_of t (d_data w)))
-                       | None => is_error a
-                       end
-           | None => is_error a
-           end
-         | _ => match a with ARows _ _ | AHist _ _ => want_commit r v t a | _ => true end   (* refusing is fine; rows must be the right ones *)
-         end
-     if revdb_denotes r v then want_commit r v t a
-    else match (norm_base r (fst v), snd v) with
-         | (BBranch b, []) =>                         (* dirty branch: `db/branch` is the branch's working set *)
-           match branch_working r b with
-           | Some w => match assoc t (d_schema w) with
-                       | Some cols => ans_eqb a (ARows cols (rows_of t (d_data w)))
-                       | None => is_error a
-                       end
-           | None => is_error a
-           end
-         | _ => match a with ARows _ _ | AHist _ _ => want_commit r v t a | _ => true end   (* refusing is fine; rows must be the right ones *)
-         end
-t    if revdb_denotes r v then want_commit r v t a
-    else match (norm_base r (fst v), snd v) with
-         | (BBranch b, []) =>                         (* dirty branch: `db/branch` is the branch's working set *)
-           match branch_working r b with
-           | Some w => match assoc t (d_schema w) with
-                       | Some cols => ans_eqb a (ARows cols (rows_of t (d_data w)))
-                       | None => is_error a
-                       end
-           | None => is_error a
-           end
-         | _ => match a with ARows _ _ | AHist _ _ => want_commit r v t a | _ => true end   (* refusing is fine; rows must be the right ones *)
-         end
-     if revdb_denotes r v then want_commit r v t a
-    else match (norm_base r (fst v), snd v) with
-         | (BBranch b, []) =>                         (* dirty branch: `db/branch` is the branch's working set *)
-           match branch_working r b with
-           | Some w => match assoc t (d_schema w) with
-                       | Some cols => ans_eqb a (ARows cols (rows_of t (d_data w)))
-                       | None => is_error a
-                       end
-           | None => is_error a
-           end
-         | _ => match a with ARows _ _ | AHist _ _ => want_commit r v t a | _ => true end   (* refusing is fine; rows must be the right ones *)
-         end
-(    if revdb_denotes r v then want_commit r v t a
-    else match (norm_base r (fst v), snd v) with
-         | (BBranch b, []) =>                         (* dirty branch: `db/branch` is the branch's working set *)
-           match branch_working r b with
-           | Some w => match assoc t (d_schema w) with
-                       | Some cols => ans_eqb a (ARows cols (rows_of t (d_data w)))
-                       | None => is_error a
-                       end
-           | None => is_error a
-           end
-         | _ => match a with ARows _ _ | AHist _ _ => want_commit r v t a | _ => true end   (* refusing is fine; rows must be the right ones *)
-         end
-s    if revdb_denotes r v then want_commit r v t a
-    else match (norm_base r (fst v), snd v) with
-         | (BBranch b, []) =>                         (* dirty branch: `db/branch` is the branch's working set *)
-           match branch_working r b with
-           | Some w => match assoc t (d_schema w) with
-                       | Some cols => ans_eqb a (ARows cols (rows_of t (d_data w)))
-                       | None => is_error a
-                       end
-           | None => is_error a
-           end
-         | _ => match a with ARows _ _ | AHist _ _ => want_commit r v t a | _ => true end   (* refusing is fine; rows must be the right ones *)
-         end
-e    if revdb_denotes r v then want_commit r v t a
-    else match (norm_base r (fst v), snd v) with
-         | (BBranch b, []) =>                         (* dirty branch: `db/branch` is the branch's working set *)
-           match branch_working r b with
-           | Some w => match assoc t (d_schema w) with
-                       | Some cols => ans_eqb a (ARows cols (rows_of t (d_data w)))
-                       | None => is_error a
-                       end
-           | None => is_error a
-           end
-         | _ => match a with ARows _ _ | AHist _ _ => want_commit r v t a | _ => true end   (* refusing is fine; rows must be the right ones *)
-         end
-e    if revdb_denotes r v then want_commit r v t a
-    else match (norm_base r (fst v), snd v) with
-         | (BBranch b, []) =>                         (* dirty branch: `db/branch` is the branch's working set *)
-           match branch_working r b with
-           | Some w => match assoc t (d_schema w) with
-                       | Some cols => ans_eqb a (ARows cols (rows_of t (d_data w)))
-                       | None => is_error a
-                       end
-           | None => is_error a
-           end
-         | _ => match a with ARows _ _ | AHist _ _ => want_commit r v t a | _ => true end   (* refusing is fine; rows must be the right ones *)
-         end
-     if revdb_denotes r v then want_commit r v t a
-    else match (norm_base r (fst v), snd v) with
-         | (BBranch b, []) =>                         (* dirty branch: `db/branch` is the branch's working set *)
-           match branch_working r b with
-           | Some w => match assoc t (d_schema w) with
-                       | Some cols => ans_eqb a (ARows cols (rows_of t (d_data w)))
-                       | None => is_error a
-                       end
-           | None => is_error a
-           end
-         | _ => match a with ARows _ _ | AHist _ _ => want_commit r v t a | _ => true end   (* refusing is fine; rows must be the right ones *)
-         end
-S    if revdb_denotes r v then want_commit r v t a
-    else match (norm_base r (fst v), snd v) with
-         | (BBranch b, []) =>                         (* dirty branch: `db/branch` is the branch's working set *)
-           match branch_working r b with
-           | Some w => match assoc t (d_schema w) with
-                       | Some cols => ans_eqb a (ARows cols (rows_of t (d_data w)))
-                       | None => is_error a
-                       end
-           | None => is_error a
-           end
-         | _ => match a with ARows _ _ | AHist _ _ => want_commit r v t a | _ => true end   (* refusing is fine; rows must be the right ones *)
-         end
-p    if revdb_denotes r v then want_commit r v t a
-    else match (norm_base r (fst v), snd v) with
-         | (BBranch b, []) =>                         (* dirty branch: `db/branch` is the branch's working set *)
-           match branch_working r b with
-           | Some w => match assoc t (d_schema w) with
-                       | Some cols => ans_eqb a (ARows cols (rows_of t (d_data w)))
-                       | None => is_error a
-                       end
-           | None => is_error a
-           end
-         | _ => match a with ARows _ _ | AHist _ _ => want_commit r v t a | _ => true end   (* refusing is fine; rows must be the right ones *)
-         end
-e    if revdb_denotes r v then want_commit r v t a
-    else match (norm_base r (fst v), snd v) with
-         | (BBranch b, []) =>                         (* dirty branch: `db/branch` is the branch's working set *)
-           match branch_working r b with
-           | Some w => match assoc t (d_schema w) with
-                       | Some cols => ans_eqb a (ARows cols (rows_of t (d_data w)))
-                       | None => is_error a
-                       end
-           | None => is_error a
-           end
-         | _ => match a with ARows _ _ | AHist _ _ => want_commit r v t a | _ => true end   (* refusing is fine; rows must be the right ones *)
-         end
-c    if revdb_denotes r v then want_commit r v t a
-    else match (norm_base r (fst v), snd v) with
-         | (BBranch b, []) =>                         (* dirty branch: `db/branch` is the branch's working set *)
-           match branch_working r b with
-           | Some w => match assoc t (d_schema w) with
-                       | Some cols => ans_eqb a (ARows cols (rows_of t (d_data w)))
-                       | None => is_error a
-                       end
-           | None => is_error a
-           end
-         | _ => match a with ARows _ _ | AHist _ _ => want_commit r v t a | _ => true end   (* refusing is fine; rows must be the right ones *)
-         end
-)    if revdb_denotes r v then want_commit r v t a
-    else match (norm_base r (fst v), snd v) with
-         | (BBranch b, []) =>                         (* dirty branch: `db/branch` is the branch's working set *)
-           match branch_working r b with
-           | Some w => match assoc t (d_schema w) with
-                       | Some cols => ans_eqb a (ARows cols (rows_of t (d_data w)))
-                       | None => is_error a
-                       end
-           | None => is_error a
-           end
-         | _ => match a with ARows _ _ | AHist _ _ => want_commit r v t a | _ => true end   (* refusing is fine; rows must be the right ones *)
-         end
-:    if revdb_denotes r v then want_commit r v t a
-    else match (norm_base r (fst v), snd v) with
-         | (BBranch b, []) =>                         (* dirty branch: `db/branch` is the branch's working set *)
-           match branch_working r b with
-           | Some w => match assoc t (d_schema w) with
-                       | Some cols => ans_eqb a (ARows cols (rows_of t (d_data w)))
-                       | None => is_error a
-                       end
-           | None => is_error a
-           end
-         | _ => match a with ARows _ _ | AHist _ _ => want_commit r v t a | _ => true end   (* refusing is fine; rows must be the right ones *)
-         end
-     if revdb_denotes r v then want_commit r v t a
-    else match (norm_base r (fst v), snd v) with
-         | (BBranch b, []) =>                         (* dirty branch: `db/branch` is the branch's working set *)
-           match branch_working r b with
-           | Some w => match assoc t (d_schema w) with
-                       | Some cols => ans_eqb a (ARows cols (rows_of t (d_data w)))
-                       | None => is_error a
-                       end
-           | None => is_error a
-           end
-         | _ => match a with ARows _ _ | AHist _ _ => want_commit r v t a | _ => true end   (* refusing is fine; rows must be the right ones *)
-         end
-i    if revdb_denotes r v then want_commit r v t a
-    else match (norm_base r (fst v), snd v) with
-         | (BBranch b, []) =>                         (* dirty branch: `db/branch` is the branch's working set *)
-           match branch_working r b with
-           | Some w => match assoc t (d_schema w) with
-                       | Some cols => ans_eqb a (ARows cols (rows_of t (d_data w)))
-                       | None => is_error a
-                       end
-           | None => is_error a
-           end
-         | _ => match a with ARows _ _ | AHist _ _ => want_commit r v t a | _ => true end   (* refusing is fine; rows must be the right ones *)
-         end
-t    if revdb_denotes r v then want_commit r v t a
-    else match (norm_base r (fst v), snd v) with
-         | (BBranch b, []) =>                         (* dirty branch: `db/branch` is the branch's working set *)
-           match branch_working r b with
-           | Some w => match assoc t (d_schema w) with
-                       | Some cols => ans_eqb a (ARows cols (rows_of t (d_data w)))
-                       | None => is_error a
-                       end
-           | None => is_error a
-           end
-         | _ => match a with ARows _ _ | AHist _ _ => want_commit r v t a | _ => true end   (* refusing is fine; rows must be the right ones *)
-         end
-     if revdb_denotes r v then want_commit r v t a
-    else match (norm_base r (fst v), snd v) with
-         | (BBranch b, []) =>                         (* dirty branch: `db/branch` is the branch's working set *)
-           match branch_working r b with
-           | Some w => match assoc t (d_schema w) with
-                       | Some cols => ans_eqb a (ARows cols (rows_of t (d_data w)))
-                       | None => is_error a
-                       end
-           | None => is_error a
-           end
-         | _ => match a with ARows _ _ | AHist _ _ => want_commit r v t a | _ => true end   (* refusing is fine; rows must be the right ones *)
-         end
-m    if revdb_denotes r v then want_commit r v t a
-    else match (norm_base r (fst v), snd v) with
-         | (BBranch b, []) =>                         (* dirty branch: `db/branch` is the branch's working set *)
-           match branch_working r b with
-           | Some w => match assoc t (d_schema w) with
-                       | Some cols => ans_eqb a (ARows cols (rows_of t (d_data w)))
-                       | None => is_error a
-                       end
-           | None => is_error a
-           end
-         | _ => match a with ARows _ _ | AHist _ _ => want_commit r v t a | _ => true end   (* refusing is fine; rows must be the right ones *)
-         end
-u    if revdb_denotes r v then want_commit r v t a
-    else match (norm_base r (fst v), snd v) with
-         | (BBranch b, []) =>                         (* dirty branch: `db/branch` is the branch's working set *)
-           match branch_working r b with
-           | Some w => match assoc t (d_schema w) with
-                       | Some cols => ans_eqb a (ARows cols (rows_of t (d_data w)))
-                       | None => is_error a
-                       end
-           | None => is_error a
-           end
-         | _ => match a with ARows _ _ | AHist _ _ => want_commit r v t a | _ => true end   (* refusing is fine; rows must be the right ones *)
-         end
-s    if revdb_denotes r v then want_commit r v t a
-    else match (norm_base r (fst v), snd v) with
-         | (BBranch b, []) =>                         (* dirty branch: `db/branch` is the branch's working set *)
-           match branch_working r b with
-           | Some w => match assoc t (d_schema w) with
-                       | Some cols => ans_eqb a (ARows cols (rows_of t (d_data w)))
-                       | None => is_error a
-                       end
-           | None => is_error a
-           end
-         | _ => match a with ARows _ _ | AHist _ _ => want_commit r v t a | _ => true end   (* refusing is fine; rows must be the right ones *)
-         end
-t    if revdb_denotes r v then want_commit r v t a
-    else match (norm_base r (fst v), snd v) with
-         | (BBranch b, []) =>                         (* dirty branch: `db/branch` is the branch's working set *)
-           match branch_working r b with
-           | Some w => match assoc t (d_schema w) with
-                       | Some cols => ans_eqb a (ARows cols (rows_of t (d_data w)))
-                       | None => is_error a
-                       end
-           | None => is_error a
-           end
-         | _ => match a with ARows _ _ | AHist _ _ => want_commit r v t a | _ => true end   (* refusing is fine; rows must be the right ones *)
-         end
-     if revdb_denotes r v then want_commit r v t a
-    else match (norm_base r (fst v), snd v) with
-         | (BBranch b, []) =>                         (* dirty branch: `db/branch` is the branch's working set *)
-           match branch_working r b with
-           | Some w => match assoc t (d_schema w) with
-                       | Some cols => ans_eqb a (ARows cols (rows_of t (d_data w)))
-                       | None => is_error a
-                       end
-           | None => is_error a
-           end
-         | _ => match a with ARows _ _ | AHist _ _ => want_commit r v t a | _ => true end   (* refusing is fine; rows must be the right ones *)
-         end
-l    if revdb_denotes r v then want_commit r v t a
-    else match (norm_base r (fst v), snd v) with
-         | (BBranch b, []) =>                         (* dirty branch: `db/branch` is the branch's working set *)
-           match branch_working r b with
-           | Some w => match assoc t (d_schema w) with
-                       | Some cols => ans_eqb a (ARows cols (rows_of t (d_data w)))
-                       | None => is_error a
-                       end
-           | None => is_error a
-           end
-         | _ => match a with ARows _ _ | AHist _ _ => want_commit r v t a | _ => true end   (* refusing is fine; rows must be the right ones *)
-         end
-i    if revdb_denotes r v then want_commit r v t a
-    else match (norm_base r (fst v), snd v) with
-         | (BBranch b, []) =>                         (* dirty branch: `db/branch` is the branch's working set *)
-           match branch_working r b with
-           | Some w => match assoc t (d_schema w) with
-                       | Some cols => ans_eqb a (ARows cols (rows_of t (d_data w)))
-                       | None => is_error a
-                       end
-           | None => is_error a
-           end
-         | _ => match a with ARows _ _ | AHist _ _ => want_commit r v t a | _ => true end   (* refusing is fine; rows must be the right ones *)
-         end
-s    if revdb_denotes r v then want_commit r v t a
-    else match (norm_base r (fst v), snd v) with
-         | (BBranch b, []) =>                         (* dirty branch: `db/branch` is the branch's working set *)
-           match branch_working r b with
-           | Some w => match assoc t (d_schema w) with
-                       | Some cols => ans_eqb a (ARows cols (rows_of t (d_data w)))
-                       | None => is_error a
-                       end
-           | None => is_error a
-           end
-         | _ => match a with ARows _ _ | AHist _ _ => want_commit r v t a | _ => true end   (* refusing is fine; rows must be the right ones *)
-         end
-t    if revdb_denotes r v then want_commit r v t a
-    else match (norm_base r (fst v), snd v) with
-         | (BBranch b, []) =>                         (* dirty branch: `db/branch` is the branch's working set *)
-           match branch_working r b with
-           | Some w => match assoc t (d_schema w) with
-                       | Some cols => ans_eqb a (ARows cols (rows_of t (d_data w)))
-                       | None => is_error a
-                       end
-           | None => is_error a
-           end
-         | _ => match a with ARows _ _ | AHist _ _ => want_commit r v t a | _ => true end   (* refusing is fine; rows must be the right ones *)
-         end
-,    if revdb_denotes r v then want_commit r v t a
-    else match (norm_base r (fst v), snd v) with
-         | (BBranch b, []) =>                         (* dirty branch: `db/branch` is the branch's working set *)
-           match branch_working r b with
-           | Some w => match assoc t (d_schema w) with
-                       | Some cols => ans_eqb a (ARows cols (rows_of t (d_data w)))
-                       | None => is_error a
-                       end
-           | None => is_error a
-           end
-         | _ => match a with ARows _ _ | AHist _ _ => want_commit r v t a | _ => true end   (* refusing is fine; rows must be the right ones *)
-         end
-
-    if revdb_denotes r v then want_commit r v t a
-    else match (norm_base r (fst v), snd v) with
-         | (BBranch b, []) =>                         (* dirty branch: `db/branch` is the branch's working set *)
-           match branch_working r b with
-           | Some w => match assoc t (d_schema w) with
-                       | Some cols => ans_eqb a (ARows cols (rows_of t (d_data w)))
-                       | None => is_error a
-                       end
-           | None => is_error a
-           end
-         | _ => match a with ARows _ _ | AHist _ _ => want_commit r v t a | _ => true end   (* refusing is fine; rows must be the right ones *)
-         end
-     if revdb_denotes r v then want_commit r v t a
-    else match (norm_base r (fst v), snd v) with
-         | (BBranch b, []) =>                         (* dirty branch: `db/branch` is the branch's working set *)
-           match branch_working r b with
-           | Some w => match assoc t (d_schema w) with
-                       | Some cols => ans_eqb a (ARows cols (rows_of t (d_data w)))
-                       | None => is_error a
-                       end
-           | None => is_error a
-           end
-         | _ => match a with ARows _ _ | AHist _ _ => want_commit r v t a | _ => true end   (* refusing is fine; rows must be the right ones *)
-         end
-     if revdb_denotes r v then want_commit r v t a
-    else match (norm_base r (fst v), snd v) with
-         | (BBranch b, []) =>                         (* dirty branch: `db/branch` is the branch's working set *)
-           match branch_working r b with
-           | Some w => match assoc t (d_schema w) with
-                       | Some cols => ans_eqb a (ARows cols (rows_of t (d_data w)))
-                       | None => is_error a
-                       end
-           | None => is_error a
-           end
-         | _ => match a with ARows _ _ | AHist _ _ => want_commit r v t a | _ => true end   (* refusing is fine; rows must be the right ones *)
-         end
-     if revdb_denotes r v then want_commit r v t a
-    else match (norm_base r (fst v), snd v) with
-         | (BBranch b, []) =>                         (* dirty branch: `db/branch` is the branch's working set *)
-           match branch_working r b with
-           | Some w => match assoc t (d_schema w) with
-                       | Some cols => ans_eqb a (ARows cols (rows_of t (d_data w)))
-                       | None => is_error a
-                       end
-           | None => is_error a
-           end
-         | _ => match a with ARows _ _ | AHist _ _ => want_commit r v t a | _ => true end   (* refusing is fine; rows must be the right ones *)
-         end
-f    if revdb_denotes r v then want_commit r v t a
-    else match (norm_base r (fst v), snd v) with
-         | (BBranch b, []) =>                         (* dirty branch: `db/branch` is the branch's working set *)
-           match branch_working r b with
-           | Some w => match assoc t (d_schema w) with
-                       | Some cols => ans_eqb a (ARows cols (rows_of t (d_data w)))
-                       | None => is_error a
-                       end
-           | None => is_error a
-           end
-         | _ => match a with ARows _ _ | AHist _ _ => want_commit r v t a | _ => true end   (* refusing is fine; rows must be the right ones *)
-         end
-o    if revdb_denotes r v then want_commit r v t a
-    else match (norm_base r (fst v), snd v) with
-         | (BBranch b, []) =>                         (* dirty branch: `db/branch` is the branch's working set *)
-           match branch_working r b with
-           | Some w => match assoc t (d_schema w) with
-                       | Some cols => ans_eqb a (ARows cols (rows_of t (d_data w)))
-                       | None => is_error a
-                       end
-           | None => is_error a
-           end
-         | _ => match a with ARows _ _ | AHist _ _ => want_commit r v t a | _ => true end   (* refusing is fine; rows must be the right ones *)
-         end
-r    if revdb_denotes r v then want_commit r v t a
-    else match (norm_base r (fst v), snd v) with
-         | (BBranch b, []) =>                         (* dirty branch: `db/branch` is the branch's working set *)
-           match branch_working r b with
-           | Some w => match assoc t (d_schema w) with
-                       | Some cols => ans_eqb a (ARows cols (rows_of t (d_data w)))
-                       | None => is_error a
-                       end
-           | None => is_error a
-           end
-         | _ => match a with ARows _ _ | AHist _ _ => want_commit r v t a | _ => true end   (* refusing is fine; rows must be the right ones *)
-         end
-     if revdb_denotes r v then want_commit r v t a
-    else match (norm_base r (fst v), snd v) with
-         | (BBranch b, []) =>                         (* dirty branch: `db/branch` is the branch's working set *)
-           match branch_working r b with
-           | Some w => match assoc t (d_schema w) with
-                       | Some cols => ans_eqb a (ARows cols (rows_of t (d_data w)))
-                       | None => is_error a
-                       end
-           | None => is_error a
-           end
-         | _ => match a with ARows _ _ | AHist _ _ => want_commit r v t a | _ => true end   (* refusing is fine; rows must be the right ones *)
-         end
-o    if revdb_denotes r v then want_commit r v t a
-    else match (norm_base r (fst v), snd v) with
-         | (BBranch b, []) =>                         (* dirty branch: `db/branch` is the branch's working set *)
-           match branch_working r b with
-           | Some w => match assoc t (d_schema w) with
-                       | Some cols => ans_eqb a (ARows cols (rows_of t (d_data w)))
-                       | None => is_error a
-                       end
-           | None => is_error a
-           end
-         | _ => match a with ARows _ _ | AHist _ _ => want_commit r v t a | _ => true end   (* refusing is fine; rows must be the right ones *)
-         end
-n    if revdb_denotes r v then want_commit r v t a
-    else match (norm_base r (fst v), snd v) with
-         | (BBranch b, []) =>                         (* dirty branch: `db/branch` is the branch's working set *)
-           match branch_working r b with
-           | Some w => match assoc t (d_schema w) with
-                       | Some cols => ans_eqb a (ARows cols (rows_of t (d_data w)))
-                       | None => is_error a
-                       end
-           | None => is_error a
-           end
-         | _ => match a with ARows _ _ | AHist _ _ => want_commit r v t a | _ => true end   (* refusing is fine; rows must be the right ones *)
-         end
-e    if revdb_denotes r v then want_commit r v t a
-    else match (norm_base r (fst v), snd v) with
-         | (BBranch b, []) =>                         (* dirty branch: `db/branch` is the branch's working set *)
-           match branch_working r b with
-           | Some w => match assoc t (d_schema w) with
-                       | Some cols => ans_eqb a (ARows cols (rows_of t (d_data w)))
-                       | None => is_error a
-                       end
-           | None => is_error a
-           end
-         | _ => match a with ARows _ _ | AHist _ _ => want_commit r v t a | _ => true end   (* refusing is fine; rows must be the right ones *)
-         end
-     if revdb_denotes r v then want_commit r v t a
-    else match (norm_base r (fst v), snd v) with
-         | (BBranch b, []) =>                         (* dirty branch: `db/branch` is the branch's working set *)
-           match branch_working r b with
-           | Some w => match assoc t (d_schema w) with
-                       | Some cols => ans_eqb a (ARows cols (rows_of t (d_data w)))
-                       | None => is_error a
-                       end
-           | None => is_error a
-           end
-         | _ => match a with ARows _ _ | AHist _ _ => want_commit r v t a | _ => true end   (* refusing is fine; rows must be the right ones *)
-         end
-c    if revdb_denotes r v then want_commit r v t a
-    else match (norm_base r (fst v), snd v) with
-         | (BBranch b, []) =>                         (* dirty branch: `db/branch` is the branch's working set *)
-           match branch_working r b with
-           | Some w => match assoc t (d_schema w) with
-                       | Some cols => ans_eqb a (ARows cols (rows_of t (d_data w)))
-                       | None => is_error a
-                       end
-           | None => is_error a
-           end
-         | _ => match a with ARows _ _ | AHist _ _ => want_commit r v t a | _ => true end   (* refusing is fine; rows must be the right ones *)
-         end
-o    if revdb_denotes r v then want_commit r v t a
-    else match (norm_base r (fst v), snd v) with
-         | (BBranch b, []) =>                         (* dirty branch: `db/branch` is the branch's working set *)
-           match branch_working r b with
-           | Some w => match assoc t (d_schema w) with
-                       | Some cols => ans_eqb a (ARows cols (rows_of t (d_data w)))
-                       | None => is_error a
-                       end
-           | None => is_error a
-           end
-         | _ => match a with ARows _ _ | AHist _ _ => want_commit r v t a | _ => true end   (* refusing is fine; rows must be the right ones *)
-         end
-m    if revdb_denotes r v then want_commit r v t a
-    else match (norm_base r (fst v), snd v) with
-         | (BBranch b, []) =>                         (* dirty branch: `db/branch` is the branch's working set *)
-           match branch_working r b with
-           | Some w => match assoc t (d_schema w) with
-                       | Some cols => ans_eqb a (ARows cols (rows_of t (d_data w)))
-                       | None => is_error a
-                       end
-           | None => is_error a
-           end
-         | _ => match a with ARows _ _ | AHist _ _ => want_commit r v t a | _ => true end   (* refusing is fine; rows must be the right ones *)
-         end
-m    if revdb_denotes r v then want_commit r v t a
-    else match (norm_base r (fst v), snd v) with
-         | (BBranch b, []) =>                         (* dirty branch: `db/branch` is the branch's working set *)
-           match branch_working r b with
-           | Some w => match assoc t (d_schema w) with
-                       | Some cols => ans_eqb a (ARows cols (rows_of t (d_data w)))
-                       | None => is_error a
-                       end
-           | None => is_error a
-           end
-         | _ => match a with ARows _ _ | AHist _ _ => want_commit r v t a | _ => true end   (* refusing is fine; rows must be the right ones *)
-         end
-i    if revdb_denotes r v then want_commit r v t a
-    else match (norm_base r (fst v), snd v) with
-         | (BBranch b, []) =>                         (* dirty branch: `db/branch` is the branch's working set *)
-           match branch_working r b with
-           | Some w => match assoc t (d_schema w) with
-                       | Some cols => ans_eqb a (ARows cols (rows_of t (d_data w)))
-                       | None => is_error a
-                       end
-           | None => is_error a
-           end
-         | _ => match a with ARows _ _ | AHist _ _ => want_commit r v t a | _ => true end   (* refusing is fine; rows must be the right ones *)
-         end
-t    if revdb_denotes r v then want_commit r v t a
-    else match (norm_base r (fst v), snd v) with
-         | (BBranch b, []) =>                         (* dirty branch: `db/branch` is the branch's working set *)
-           match branch_working r b with
-           | Some w => match assoc t (d_schema w) with
-                       | Some cols => ans_eqb a (ARows cols (rows_of t (d_data w)))
-                       | None => is_error a
-                       end
-           | None => is_error a
-           end
-         | _ => match a with ARows _ _ | AHist _ _ => want_commit r v t a | _ => true end   (* refusing is fine; rows must be the right ones *)
-         end
-,    if revdb_denotes r v then want_commit r v t a
-    else match (norm_base r (fst v), snd v) with
-         | (BBranch b, []) =>                         (* dirty branch: `db/branch` is the branch's working set *)
-           match branch_working r b with
-           | Some w => match assoc t (d_schema w) with
-                       | Some cols => ans_eqb a (ARows cols (rows_of t (d_data w)))
-                       | None => is_error a
-                       end
-           | None => is_error a
-           end
-         | _ => match a with ARows _ _ | AHist _ _ => want_commit r v t a | _ => true end   (* refusing is fine; rows must be the right ones *)
-         end
-     if revdb_denotes r v then want_commit r v t a
-    else match (norm_base r (fst v), snd v) with
-         | (BBranch b, []) =>                         (* dirty branch: `db/branch` is the branch's working set *)
-           match branch_working r b with
-           | Some w => match assoc t (d_schema w) with
-                       | Some cols => ans_eqb a (ARows cols (rows_of t (d_data w)))
-                       | None => is_error a
-                       end
-           | None => is_error a
-           end
-         | _ => match a with ARows _ _ | AHist _ _ => want_commit r v t a | _ => true end   (* refusing is fine; rows must be the right ones *)
-         end
-t    if revdb_denotes r v then want_commit r v t a
-    else match (norm_base r (fst v), snd v) with
-         | (BBranch b, []) =>                         (* dirty branch: `db/branch` is the branch's working set *)
-           match branch_working r b with
-           | Some w => match assoc t (d_schema w) with
-                       | Some cols => ans_eqb a (ARows cols (rows_of t (d_data w)))
-                       | None => is_error a
-                       end
-           | None => is_error a
-           end
-         | _ => match a with ARows _ _ | AHist _ _ => want_commit r v t a | _ => true end   (* refusing is fine; rows must be the right ones *)
-         end
-h    if revdb_denotes r v then want_commit r v t a
-    else match (norm_base r (fst v), snd v) with
-         | (BBranch b, []) =>                         (* dirty branch: `db/branch` is the branch's working set *)
-           match branch_working r b with
-           | Some w => match assoc t (d_schema w) with
-                       | Some cols => ans_eqb a (ARows cols (rows_of t (d_data w)))
-                       | None => is_error a
-                       end
-           | None => is_error a
-           end
-         | _ => match a with ARows _ _ | AHist _ _ => want_commit r v t a | _ => true end   (* refusing is fine; rows must be the right ones *)
-         end
-a    if revdb_denotes r v then want_commit r v t a
-    else match (norm_base r (fst v), snd v) with
-         | (BBranch b, []) =>                         (* dirty branch: `db/branch` is the branch's working set *)
-           match branch_working r b with
-           | Some w => match assoc t (d_schema w) with
-                       | Some cols => ans_eqb a (ARows cols (rows_of t (d_data w)))
-                       | None => is_error a
-                       end
-           | None => is_error a
-           end
-         | _ => match a with ARows _ _ | AHist _ _ => want_commit r v t a | _ => true end   (* refusing is fine; rows must be the right ones *)
-         end
-t    if revdb_denotes r v then want_commit r v t a
-    else match (norm_base r (fst v), snd v) with
-         | (BBranch b, []) =>                         (* dirty branch: `db/branch` is the branch's working set *)
-           match branch_working r b with
-           | Some w => match assoc t (d_schema w) with
-                       | Some cols => ans_eqb a (ARows cols (rows_of t (d_data w)))
-                       | None => is_error a
-                       end
-           | None => is_error a
-           end
-         | _ => match a with ARows _ _ | AHist _ _ => want_commit r v t a | _ => true end   (* refusing is fine; rows must be the right ones *)
-         end
-     if revdb_denotes r v then want_commit r v t a
-    else match (norm_base r (fst v), snd v) with
-         | (BBranch b, []) =>                         (* dirty branch: `db/branch` is the branch's working set *)
-           match branch_working r b with
-           | Some w => match assoc t (d_schema w) with
-                       | Some cols => ans_eqb a (ARows cols (rows_of t (d_data w)))
-                       | None => is_error a
-                       end
-           | None => is_error a
-           end
-         | _ => match a with ARows _ _ | AHist _ _ => want_commit r v t a | _ => true end   (* refusing is fine; rows must be the right ones *)
-         end
-c    if revdb_denotes r v then want_commit r v t a
-    else match (norm_base r (fst v), snd v) with
-         | (BBranch b, []) =>                         (* dirty branch: `db/branch` is the branch's working set *)
-           match branch_working r b with
-           | Some w => match assoc t (d_schema w) with
-                       | Some cols => ans_eqb a (ARows cols (rows_of t (d_data w)))
-                       | None => is_error a
-                       end
-           | None => is_error a
-           end
-         | _ => match a with ARows _ _ | AHist _ _ => want_commit r v t a | _ => true end   (* refusing is fine; rows must be the right ones *)
-         end
-o    if revdb_denotes r v then want_commit r v t a
-    else match (norm_base r (fst v), snd v) with
-         | (BBranch b, []) =>                         (* dirty branch: `db/branch` is the branch's working set *)
-           match branch_working r b with
-           | Some w => match assoc t (d_schema w) with
-                       | Some cols => ans_eqb a (ARows cols (rows_of t (d_data w)))
-                       | None => is_error a
-                       end
-           | None => is_error a
-           end
-         | _ => match a with ARows _ _ | AHist _ _ => want_commit r v t a | _ => true end   (* refusing is fine; rows must be the right ones *)
-         end
-m    if revdb_denotes r v then want_commit r v t a
-    else match (norm_base r (fst v), snd v) with
-         | (BBranch b, []) =>                         (* dirty branch: `db/branch` is the branch's working set *)
-           match branch_working r b with
-           | Some w => match assoc t (d_schema w) with
-                       | Some cols => ans_eqb a (ARows cols (rows_of t (d_data w)))
-                       | None => is_error a
-                       end
-           | None => is_error a
-           end
-         | _ => match a with ARows _ _ | AHist _ _ => want_commit r v t a | _ => true end   (* refusing is fine; rows must be the right ones *)
-         end
-m    if revdb_denotes r v then want_commit r v t a
-    else match (norm_base r (fst v), snd v) with
-         | (BBranch b, []) =>                         (* dirty branch: `db/branch` is the branch's working set *)
-           match branch_working r b with
-           | Some w => match assoc t (d_schema w) with
-                       | Some cols => ans_eqb a (ARows cols (rows_of t (d_data w)))
-                       | None => is_error a
-                       end
-           | None => is_error a
-           end
-         | _ => match a with ARows _ _ | AHist _ _ => want_commit r v t a | _ => true end   (* refusing is fine; rows must be the right ones *)
-         end
-i    if revdb_denotes r v then want_commit r v t a
-    else match (norm_base r (fst v), snd v) with
-         | (BBranch b, []) =>                         (* dirty branch: `db/branch` is the branch's working set *)
-           match branch_working r b with
-           | Some w => match assoc t (d_schema w) with
-                       | Some cols => ans_eqb a (ARows cols (rows_of t (d_data w)))
-                       | None => is_error a
-                       end
-           | None => is_error a
-           end
-         | _ => match a with ARows _ _ | AHist _ _ => want_commit r v t a | _ => true end   (* refusing is fine; rows must be the right ones *)
-         end
-t    if revdb_denotes r v then want_commit r v t a
-    else match (norm_base r (fst v), snd v) with
-         | (BBranch b, []) =>                         (* dirty branch: `db/branch` is the branch's working set *)
-           match branch_working r b with
-           | Some w => match assoc t (d_schema w) with
-                       | Some cols => ans_eqb a (ARows cols (rows_of t (d_data w)))
-                       | None => is_error a
-                       end
-           | None => is_error a
-           end
-         | _ => match a with ARows _ _ | AHist _ _ => want_commit r v t a | _ => true end   (* refusing is fine; rows must be the right ones *)
-         end
-'    if revdb_denotes r v then want_commit r v t a
-    else match (norm_base r (fst v), snd v) with
-         | (BBranch b, []) =>                         (* dirty branch: `db/branch` is the branch's working set *)
-           match branch_working r b with
-           | Some w => match assoc t (d_schema w) with
-                       | Some cols => ans_eqb a (ARows cols (rows_of t (d_data w)))
-                       | None => is_error a
-                       end
-           | None => is_error a
-           end
-         | _ => match a with ARows _ _ | AHist _ _ => want_commit r v t a | _ => true end   (* refusing is fine; rows must be the right ones *)
-         end
-s    if revdb_denotes r v then want_commit r v t a
-    else match (norm_base r (fst v), snd v) with
-         | (BBranch b, []) =>                         (* dirty branch: `db/branch` is the branch's working set *)
-           match branch_working r b with
-           | Some w => match assoc t (d_schema w) with
-                       | Some cols => ans_eqb a (ARows cols (rows_of t (d_data w)))
-                       | None => is_error a
-                       end
-           | None => is_error a
-           end
-         | _ => match a with ARows _ _ | AHist _ _ => want_commit r v t a | _ => true end   (* refusing is fine; rows must be the right ones *)
-         end
-     if revdb_denotes r v then want_commit r v t a
-    else match (norm_base r (fst v), snd v) with
-         | (BBranch b, []) =>                         (* dirty branch: `db/branch` is the branch's working set *)
-           match branch_working r b with
-           | Some w => match assoc t (d_schema w) with
-                       | Some cols => ans_eqb a (ARows cols (rows_of t (d_data w)))
-                       | None => is_error a
-                       end
-           | None => is_error a
-           end
-         | _ => match a with ARows _ _ | AHist _ _ => want_commit r v t a | _ => true end   (* refusing is fine; rows must be the right ones *)
-         end
-r    if revdb_denotes r v then want_commit r v t a
-    else match (norm_base r (fst v), snd v) with
-         | (BBranch b, []) =>                         (* dirty branch: `db/branch` is the branch's working set *)
-           match branch_working r b with
-           | Some w => match assoc t (d_schema w) with
-                       | Some cols => ans_eqb a (ARows cols (rows_of t (d_data w)))
-                       | None => is_error a
-                       end
-           | None => is_error a
-           end
-         | _ => match a with ARows _ _ | AHist _ _ => want_commit r v t a | _ => true end   (* refusing is fine; rows must be the right ones *)
-         end
-o    if revdb_denotes r v then want_commit r v t a
-    else match (norm_base r (fst v), snd v) with
-         | (BBranch b, []) =>                         (* dirty branch: `db/branch` is the branch's working set *)
-           match branch_working r b with
-           | Some w => match assoc t (d_schema w) with
-                       | Some cols => ans_eqb a (ARows cols (rows_of t (d_data w)))
-                       | None => is_error a
-                       end
-           | None => is_error a
-           end
-         | _ => match a with ARows _ _ | AHist _ _ => want_commit r v t a | _ => true end   (* refusing is fine; rows must be the right ones *)
-         end
-w    if revdb_denotes r v then want_commit r v t a
-    else match (norm_base r (fst v), snd v) with
-         | (BBranch b, []) =>                         (* dirty branch: `db/branch` is the branch's working set *)
-           match branch_working r b with
-           | Some w => match assoc t (d_schema w) with
-                       | Some cols => ans_eqb a (ARows cols (rows_of t (d_data w)))
-                       | None => is_error a
-                       end
-           | None => is_error a
-           end
-         | _ => match a with ARows _ _ | AHist _ _ => want_commit r v t a | _ => true end   (* refusing is fine; rows must be the right ones *)
-         end
-s    if revdb_denotes r v then want_commit r v t a
-    else match (norm_base r (fst v), snd v) with
-         | (BBranch b, []) =>                         (* dirty branch: `db/branch` is the branch's working set *)
-           match branch_working r b with
-           | Some w => match assoc t (d_schema w) with
-                       | Some cols => ans_eqb a (ARows cols (rows_of t (d_data w)))
-                       | None => is_error a
-                       end
-           | None => is_error a
-           end
-         | _ => match a with ARows _ _ | AHist _ _ => want_commit r v t a | _ => true end   (* refusing is fine; rows must be the right ones *)
-         end
-     if revdb_denotes r v then want_commit r v t a
-    else match (norm_base r (fst v), snd v) with
-         | (BBranch b, []) =>                         (* dirty branch: `db/branch` is the branch's working set *)
-           match branch_working r b with
-           | Some w => match assoc t (d_schema w) with
-                       | Some cols => ans_eqb a (ARows cols (rows_of t (d_data w)))
-                       | None => is_error a
-                       end
-           | None => is_error a
-           end
-         | _ => match a with ARows _ _ | AHist _ _ => want_commit r v t a | _ => true end   (* refusing is fine; rows must be the right ones *)
-         end
-s    if revdb_denotes r v then want_commit r v t a
-    else match (norm_base r (fst v), snd v) with
-         | (BBranch b, []) =>                         (* dirty branch: `db/branch` is the branch's working set *)
-           match branch_working r b with
-           | Some w => match assoc t (d_schema w) with
-                       | Some cols => ans_eqb a (ARows cols (rows_of t (d_data w)))
-                       | None => is_error a
-                       end
-           | None => is_error a
-           end
-         | _ => match a with ARows _ _ | AHist _ _ => want_commit r v t a | _ => true end   (* refusing is fine; rows must be the right ones *)
-         end
-e    if revdb_denotes r v then want_commit r v t a
-    else match (norm_base r (fst v), snd v) with
-         | (BBranch b, []) =>                         (* dirty branch: `db/branch` is the branch's working set *)
-           match branch_working r b with
-           | Some w => match assoc t (d_schema w) with
-                       | Some cols => ans_eqb a (ARows cols (rows_of t (d_data w)))
-                       | None => is_error a
-                       end
-           | None => is_error a
-           end
-         | _ => match a with ARows _ _ | AHist _ _ => want_commit r v t a | _ => true end   (* refusing is fine; rows must be the right ones *)
-         end
-e    if revdb_denotes r v then want_commit r v t a
-    else match (norm_base r (fst v), snd v) with
-         | (BBranch b, []) =>                         (* dirty branch: `db/branch` is the branch's working set *)
-           match branch_working r b with
-           | Some w => match assoc t (d_schema w) with
-                       | Some cols => ans_eqb a (ARows cols (rows_of t (d_data w)))
-                       | None => is_error a
-                       end
-           | None => is_error a
-           end
-         | _ => match a with ARows _ _ | AHist _ _ => want_commit r v t a | _ => true end   (* refusing is fine; rows must be the right ones *)
-         end
-n    if revdb_denotes r v then want_commit r v t a
-    else match (norm_base r (fst v), snd v) with
-         | (BBranch b, []) =>                         (* dirty branch: `db/branch` is the branch's working set *)
-           match branch_working r b with
-           | Some w => match assoc t (d_schema w) with
-                       | Some cols => ans_eqb a (ARows cols (rows_of t (d_data w)))
-                       | None => is_error a
-                       end
-           | None => is_error a
-           end
-         | _ => match a with ARows _ _ | AHist _ _ => want_commit r v t a | _ => true end   (* refusing is fine; rows must be the right ones *)
-         end
-     if revdb_denotes r v then want_commit r v t a
-    else match (norm_base r (fst v), snd v) with
-         | (BBranch b, []) =>                         (* dirty branch: `db/branch` is the branch's working set *)
-           match branch_working r b with
-           | Some w => match assoc t (d_schema w) with
-                       | Some cols => ans_eqb a (ARows cols (rows_of t (d_data w)))
-                       | None => is_error a
-                       end
-           | None => is_error a
-           end
-         | _ => match a with ARows _ _ | AHist _ _ => want_commit r v t a | _ => true end   (* refusing is fine; rows must be the right ones *)
-         end
-t    if revdb_denotes r v then want_commit r v t a
-    else match (norm_base r (fst v), snd v) with
-         | (BBranch b, []) =>                         (* dirty branch: `db/branch` is the branch's working set *)
-           match branch_working r b with
-           | Some w => match assoc t (d_schema w) with
-                       | Some cols => ans_eqb a (ARows cols (rows_of t (d_data w)))
-                       | None => is_error a
-                       end
-           | None => is_error a
-           end
-         | _ => match a with ARows _ _ | AHist _ _ => want_commit r v t a | _ => true end   (* refusing is fine; rows must be the right ones *)
-         end
-h    if revdb_denotes r v then want_commit r v t a
-    else match (norm_base r (fst v), snd v) with
-         | (BBranch b, []) =>                         (* dirty branch: `db/branch` is the branch's working set *)
-           match branch_working r b with
-           | Some w => match assoc t (d_schema w) with
-                       | Some cols => ans_eqb a (ARows cols (rows_of t (d_data w)))
-                       | None => is_error a
-                       end
-           | None => is_error a
-           end
-         | _ => match a with ARows _ _ | AHist _ _ => want_commit r v t a | _ => true end   (* refusing is fine; rows must be the right ones *)
-         end
-r    if revdb_denotes r v then want_commit r v t a
-    else match (norm_base r (fst v), snd v) with
-         | (BBranch b, []) =>                         (* dirty branch: `db/branch` is the branch's working set *)
-           match branch_working r b with
-           | Some w => match assoc t (d_schema w) with
-                       | Some cols => ans_eqb a (ARows cols (rows_of t (d_data w)))
-                       | None => is_error a
-                       end
-           | None => is_error a
-           end
-         | _ => match a with ARows _ _ | AHist _ _ => want_commit r v t a | _ => true end   (* refusing is fine; rows must be the right ones *)
-         end
-o    if revdb_denotes r v then want_commit r v t a
-    else match (norm_base r (fst v), snd v) with
-         | (BBranch b, []) =>                         (* dirty branch: `db/branch` is the branch's working set *)
-           match branch_working r b with
-           | Some w => match assoc t (d_schema w) with
-                       | Some cols => ans_eqb a (ARows cols (rows_of t (d_data w)))
-                       | None => is_error a
-                       end
-           | None => is_error a
-           end
-         | _ => match a with ARows _ _ | AHist _ _ => want_commit r v t a | _ => true end   (* refusing is fine; rows must be the right ones *)
-         end
-u    if revdb_denotes r v then want_commit r v t a
-    else match (norm_base r (fst v), snd v) with
-         | (BBranch b, []) =>                         (* dirty branch: `db/branch` is the branch's working set *)
-           match branch_working r b with
-           | Some w => match assoc t (d_schema w) with
-                       | Some cols => ans_eqb a (ARows cols (rows_of t (d_data w)))
-                       | None => is_error a
-                       end
-           | None => is_error a
-           end
-         | _ => match a with ARows _ _ | AHist _ _ => want_commit r v t a | _ => true end   (* refusing is fine; rows must be the right ones *)
-         end
-g    if revdb_denotes r v then want_commit r v t a
-    else match (norm_base r (fst v), snd v) with
-         | (BBranch b, []) =>                         (* dirty branch: `db/branch` is the branch's working set *)
-           match branch_working r b with
-           | Some w => match assoc t (d_schema w) with
-                       | Some cols => ans_eqb a (ARows cols (rows_of t (d_data w)))
-                       | None => is_error a
-                       end
-           | None => is_error a
-           end
-         | _ => match a with ARows _ _ | AHist _ _ => want_commit r v t a | _ => true end   (* refusing is fine; rows must be the right ones *)
-         end
-h    if revdb_denotes r v then want_commit r v t a
-    else match (norm_base r (fst v), snd v) with
-         | (BBranch b, []) =>                         (* dirty branch: `db/branch` is the branch's working set *)
-           match branch_working r b with
-           | Some w => match assoc t (d_schema w) with
-                       | Some cols => ans_eqb a (ARows cols (rows_of t (d_data w)))
-                       | None => is_error a
-                       end
-           | None => is_error a
-           end
-         | _ => match a with ARows _ _ | AHist _ _ => want_commit r v t a | _ => true end   (* refusing is fine; rows must be the right ones *)
-         end
-     if revdb_denotes r v then want_commit r v t a
-    else match (norm_base r (fst v), snd v) with
-         | (BBranch b, []) =>                         (* dirty branch: `db/branch` is the branch's working set *)
-           match branch_working r b with
-           | Some w => match assoc t (d_schema w) with
-                       | Some cols => ans_eqb a (ARows cols (rows_of t (d_data w)))
-                       | None => is_error a
-                       end
-           | None => is_error a
-           end
-         | _ => match a with ARows _ _ | AHist _ _ => want_commit r v t a | _ => true end   (* refusing is fine; rows must be the right ones *)
-         end
-t    if revdb_denotes r v then want_commit r v t a
-    else match (norm_base r (fst v), snd v) with
-         | (BBranch b, []) =>                         (* dirty branch: `db/branch` is the branch's working set *)
-           match branch_working r b with
-           | Some w => match assoc t (d_schema w) with
-                       | Some cols => ans_eqb a (ARows cols (rows_of t (d_data w)))
-                       | None => is_error a
-                       end
-           | None => is_error a
-           end
-         | _ => match a with ARows _ _ | AHist _ _ => want_commit r v t a | _ => true end   (* refusing is fine; rows must be the right ones *)
-         end
-h    if revdb_denotes r v then want_commit r v t a
-    else match (norm_base r (fst v), snd v) with
-         | (BBranch b, []) =>                         (* dirty branch: `db/branch` is the branch's working set *)
-           match branch_working r b with
-           | Some w => match assoc t (d_schema w) with
-                       | Some cols => ans_eqb a (ARows cols (rows_of t (d_data w)))
-                       | None => is_error a
-                       end
-           | None => is_error a
-           end
-         | _ => match a with ARows _ _ | AHist _ _ => want_commit r v t a | _ => true end   (* refusing is fine; rows must be the right ones *)
-         end
-a    if revdb_denotes r v then want_commit r v t a
-    else match (norm_base r (fst v), snd v) with
-         | (BBranch b, []) =>                         (* dirty branch: `db/branch` is the branch's working set *)
-           match branch_working r b with
-           | Some w => match assoc t (d_schema w) with
-                       | Some cols => ans_eqb a (ARows cols (rows_of t (d_data w)))
-                       | None => is_error a
-                       end
-           | None => is_error a
-           end
-         | _ => match a with ARows _ _ | AHist _ _ => want_commit r v t a | _ => true end   (* refusing is fine; rows must be the right ones *)
-         end
-t    if revdb_denotes r v then want_commit r v t a
-    else match (norm_base r (fst v), snd v) with
-         | (BBranch b, []) =>                         (* dirty branch: `db/branch` is the branch's working set *)
-           match branch_working r b with
-           | Some w => match assoc t (d_schema w) with
-                       | Some cols => ans_eqb a (ARows cols (rows_of t (d_data w)))
-                       | None => is_error a
-                       end
-           | None => is_error a
-           end
-         | _ => match a with ARows _ _ | AHist _ _ => want_commit r v t a | _ => true end   (* refusing is fine; rows must be the right ones *)
-         end
-     if revdb_denotes r v then want_commit r v t a
-    else match (norm_base r (fst v), snd v) with
-         | (BBranch b, []) =>                         (* dirty branch: `db/branch` is the branch's working set *)
-           match branch_working r b with
-           | Some w => match assoc t (d_schema w) with
-                       | Some cols => ans_eqb a (ARows cols (rows_of t (d_data w)))
-                       | None => is_error a
-                       end
-           | None => is_error a
-           end
-         | _ => match a with ARows _ _ | AHist _ _ => want_commit r v t a | _ => true end   (* refusing is fine; rows must be the right ones *)
-         end
-s    if revdb_denotes r v then want_commit r v t a
-    else match (norm_base r (fst v), snd v) with
-         | (BBranch b, []) =>                         (* dirty branch: `db/branch` is the branch's working set *)
-           match branch_working r b with
-           | Some w => match assoc t (d_schema w) with
-                       | Some cols => ans_eqb a (ARows cols (rows_of t (d_data w)))
-                       | None => is_error a
-                       end
-           | None => is_error a
-           end
-         | _ => match a with ARows _ _ | AHist _ _ => want_commit r v t a | _ => true end   (* refusing is fine; rows must be the right ones *)
-         end
-c    if revdb_denotes r v then want_commit r v t a
-    else match (norm_base r (fst v), snd v) with
-         | (BBranch b, []) =>                         (* dirty branch: `db/branch` is the branch's working set *)
-           match branch_working r b with
-           | Some w => match assoc t (d_schema w) with
-                       | Some cols => ans_eqb a (ARows cols (rows_of t (d_data w)))
-                       | None => is_error a
-                       end
-           | None => is_error a
-           end
-         | _ => match a with ARows _ _ | AHist _ _ => want_commit r v t a | _ => true end   (* refusing is fine; rows must be the right ones *)
-         end
-h    if revdb_denotes r v then want_commit r v t a
-    else match (norm_base r (fst v), snd v) with
-         | (BBranch b, []) =>                         (* dirty branch: `db/branch` is the branch's working set *)
-           match branch_working r b with
-           | Some w => match assoc t (d_schema w) with
-                       | Some cols => ans_eqb a (ARows cols (rows_of t (d_data w)))
-                       | None => is_error a
-                       end
-           | None => is_error a
-           end
-         | _ => match a with ARows _ _ | AHist _ _ => want_commit r v t a | _ => true end   (* refusing is fine; rows must be the right ones *)
-         end
-e    if revdb_denotes r v then want_commit r v t a
-    else match (norm_base r (fst v), snd v) with
-         | (BBranch b, []) =>                         (* dirty branch: `db/branch` is the branch's working set *)
-           match branch_working r b with
-           | Some w => match assoc t (d_schema w) with
-                       | Some cols => ans_eqb a (ARows cols (rows_of t (d_data w)))
-                       | None => is_error a
-                       end
-           | None => is_error a
-           end
-         | _ => match a with ARows _ _ | AHist _ _ => want_commit r v t a | _ => true end   (* refusing is fine; rows must be the right ones *)
-         end
-m    if revdb_denotes r v then want_commit r v t a
-    else match (norm_base r (fst v), snd v) with
-         | (BBranch b, []) =>                         (* dirty branch: `db/branch` is the branch's working set *)
-           match branch_working r b with
-           | Some w => match assoc t (d_schema w) with
-                       | Some cols => ans_eqb a (ARows cols (rows_of t (d_data w)))
-                       | None => is_error a
-                       end
-           | None => is_error a
-           end
-         | _ => match a with ARows _ _ | AHist _ _ => want_commit r v t a | _ => true end   (* refusing is fine; rows must be the right ones *)
-         end
-a    if revdb_denotes r v then want_commit r v t a
-    else match (norm_base r (fst v), snd v) with
-         | (BBranch b, []) =>                         (* dirty branch: `db/branch` is the branch's working set *)
-           match branch_working r b with
-           | Some w => match assoc t (d_schema w) with
-                       | Some cols => ans_eqb a (ARows cols (rows_of t (d_data w)))
-                       | None => is_error a
-                       end
-           | None => is_error a
-           end
-         | _ => match a with ARows _ _ | AHist _ _ => want_commit r v t a | _ => true end   (* refusing is fine; rows must be the right ones *)
-         end
-,    if revdb_denotes r v then want_commit r v t a
-    else match (norm_base r (fst v), snd v) with
-         | (BBranch b, []) =>                         (* dirty branch: `db/branch` is the branch's working set *)
-           match branch_working r b with
-           | Some w => match assoc t (d_schema w) with
-                       | Some cols => ans_eqb a (ARows cols (rows_of t (d_data w)))
-                       | None => is_error a
-                       end
-           | None => is_error a
-           end
-         | _ => match a with ARows _ _ | AHist _ _ => want_commit r v t a | _ => true end   (* refusing is fine; rows must be the right ones *)
-         end
-     if revdb_denotes r v then want_commit r v t a
-    else match (norm_base r (fst v), snd v) with
-         | (BBranch b, []) =>                         (* dirty branch: `db/branch` is the branch's working set *)
-           match branch_working r b with
-           | Some w => match assoc t (d_schema w) with
-                       | Some cols => ans_eqb a (ARows cols (rows_of t (d_data w)))
-                       | None => is_error a
-                       end
-           | None => is_error a
-           end
-         | _ => match a with ARows _ _ | AHist _ _ => want_commit r v t a | _ => true end   (* refusing is fine; rows must be the right ones *)
-         end
-a    if revdb_denotes r v then want_commit r v t a
-    else match (norm_base r (fst v), snd v) with
-         | (BBranch b, []) =>                         (* dirty branch: `db/branch` is the branch's working set *)
-           match branch_working r b with
-           | Some w => match assoc t (d_schema w) with
-                       | Some cols => ans_eqb a (ARows cols (rows_of t (d_data w)))
-                       | None => is_error a
-                       end
-           | None => is_error a
-           end
-         | _ => match a with ARows _ _ | AHist _ _ => want_commit r v t a | _ => true end   (* refusing is fine; rows must be the right ones *)
-         end
-n    if revdb_denotes r v then want_commit r v t a
-    else match (norm_base r (fst v), snd v) with
-         | (BBranch b, []) =>                         (* dirty branch: `db/branch` is the branch's working set *)
-           match branch_working r b with
-           | Some w => match assoc t (d_schema w) with
-                       | Some cols => ans_eqb a (ARows cols (rows_of t (d_data w)))
-                       | None => is_error a
-                       end
-           | None => is_error a
-           end
-         | _ => match a with ARows _ _ | AHist _ _ => want_commit r v t a | _ => true end   (* refusing is fine; rows must be the right ones *)
-         end
-d    if revdb_denotes r v then want_commit r v t a
-    else match (norm_base r (fst v), snd v) with
-         | (BBranch b, []) =>                         (* dirty branch: `db/branch` is the branch's working set *)
-           match branch_working r b with
-           | Some w => match assoc t (d_schema w) with
-                       | Some cols => ans_eqb a (ARows cols (rows_of t (d_data w)))
-                       | None => is_error a
-                       end
-           | None => is_error a
-           end
-         | _ => match a with ARows _ _ | AHist _ _ => want_commit r v t a | _ => true end   (* refusing is fine; rows must be the right ones *)
-         end
-     if revdb_denotes r v then want_commit r v t a
-    else match (norm_base r (fst v), snd v) with
-         | (BBranch b, []) =>                         (* dirty branch: `db/branch` is the branch's working set *)
-           match branch_working r b with
-           | Some w => match assoc t (d_schema w) with
-                       | Some cols => ans_eqb a (ARows cols (rows_of t (d_data w)))
-                       | None => is_error a
-                       end
-           | None => is_error a
-           end
-         | _ => match a with ARows _ _ | AHist _ _ => want_commit r v t a | _ => true end   (* refusing is fine; rows must be the right ones *)
-         end
-a    if revdb_denotes r v then want_commit r v t a
-    else match (norm_base r (fst v), snd v) with
-         | (BBranch b, []) =>                         (* dirty branch: `db/branch` is the branch's working set *)
-           match branch_working r b with
-           | Some w => match assoc t (d_schema w) with
-                       | Some cols => ans_eqb a (ARows cols (rows_of t (d_data w)))
-                       | None => is_error a
-                       end
-           | None => is_error a
-           end
-         | _ => match a with ARows _ _ | AHist _ _ => want_commit r v t a | _ => true end   (* refusing is fine; rows must be the right ones *)
-         end
-s    if revdb_denotes r v then want_commit r v t a
-    else match (norm_base r (fst v), snd v) with
-         | (BBranch b, []) =>                         (* dirty branch: `db/branch` is the branch's working set *)
-           match branch_working r b with
-           | Some w => match assoc t (d_schema w) with
-                       | Some cols => ans_eqb a (ARows cols (rows_of t (d_data w)))
-                       | None => is_error a
-                       end
-           | None => is_error a
-           end
-         | _ => match a with ARows _ _ | AHist _ _ => want_commit r v t a | _ => true end   (* refusing is fine; rows must be the right ones *)
-         end
-     if revdb_denotes r v then want_commit r v t a
-    else match (norm_base r (fst v), snd v) with
-         | (BBranch b, []) =>                         (* dirty branch: `db/branch` is the branch's working set *)
-           match branch_working r b with
-           | Some w => match assoc t (d_schema w) with
-                       | Some cols => ans_eqb a (ARows cols (rows_of t (d_data w)))
-                       | None => is_error a
-                       end
-           | None => is_error a
-           end
-         | _ => match a with ARows _ _ | AHist _ _ => want_commit r v t a | _ => true end   (* refusing is fine; rows must be the right ones *)
-         end
-a    if revdb_denotes r v then want_commit r v t a
-    else match (norm_base r (fst v), snd v) with
-         | (BBranch b, []) =>                         (* dirty branch: `db/branch` is the branch's working set *)
-           match branch_working r b with
-           | Some w => match assoc t (d_schema w) with
-                       | Some cols => ans_eqb a (ARows cols (rows_of t (d_data w)))
-                       | None => is_error a
-                       end
-           | None => is_error a
-           end
-         | _ => match a with ARows _ _ | AHist _ _ => want_commit r v t a | _ => true end   (* refusing is fine; rows must be the right ones *)
-         end
-     if revdb_denotes r v then want_commit r v t a
-    else match (norm_base r (fst v), snd v) with
-         | (BBranch b, []) =>                         (* dirty branch: `db/branch` is the branch's working set *)
-           match branch_working r b with
-           | Some w => match assoc t (d_schema w) with
-                       | Some cols => ans_eqb a (ARows cols (rows_of t (d_data w)))
-                       | None => is_error a
-                       end
-           | None => is_error a
-           end
-         | _ => match a with ARows _ _ | AHist _ _ => want_commit r v t a | _ => true end   (* refusing is fine; rows must be the right ones *)
-         end
-w    if revdb_denotes r v then want_commit r v t a
-    else match (norm_base r (fst v), snd v) with
-         | (BBranch b, []) =>                         (* dirty branch: `db/branch` is the branch's working set *)
-           match branch_working r b with
-           | Some w => match assoc t (d_schema w) with
-                       | Some cols => ans_eqb a (ARows cols (rows_of t (d_data w)))
-                       | None => is_error a
-                       end
-           | None => is_error a
-           end
-         | _ => match a with ARows _ _ | AHist _ _ => want_commit r v t a | _ => true end   (* refusing is fine; rows must be the right ones *)
-         end
-h    if revdb_denotes r v then want_commit r v t a
-    else match (norm_base r (fst v), snd v) with
-         | (BBranch b, []) =>                         (* dirty branch: `db/branch` is the branch's working set *)
-           match branch_working r b with
-           | Some w => match assoc t (d_schema w) with
-                       | Some cols => ans_eqb a (ARows cols (rows_of t (d_data w)))
-                       | None => is_error a
-                       end
-           | None => is_error a
-           end
-         | _ => match a with ARows _ _ | AHist _ _ => want_commit r v t a | _ => true end   (* refusing is fine; rows must be the right ones *)
-         end
-o    if revdb_denotes r v then want_commit r v t a
-    else match (norm_base r (fst v), snd v) with
-         | (BBranch b, []) =>                         (* dirty branch: `db/branch` is the branch's working set *)
-           match branch_working r b with
-           | Some w => match assoc t (d_schema w) with
-                       | Some cols => ans_eqb a (ARows cols (rows_of t (d_data w)))
-                       | None => is_error a
-                       end
-           | None => is_error a
-           end
-         | _ => match a with ARows _ _ | AHist _ _ => want_commit r v t a | _ => true end   (* refusing is fine; rows must be the right ones *)
-         end
-l    if revdb_denotes r v then want_commit r v t a
-    else match (norm_base r (fst v), snd v) with
-         | (BBranch b, []) =>                         (* dirty branch: `db/branch` is the branch's working set *)
-           match branch_working r b with
-           | Some w => match assoc t (d_schema w) with
-                       | Some cols => ans_eqb a (ARows cols (rows_of t (d_data w)))
-                       | None => is_error a
-                       end
-           | None => is_error a
-           end
-         | _ => match a with ARows _ _ | AHist _ _ => want_commit r v t a | _ => true end   (* refusing is fine; rows must be the right ones *)
-         end
-e    if revdb_denotes r v then want_commit r v t a
-    else match (norm_base r (fst v), snd v) with
-         | (BBranch b, []) =>                         (* dirty branch: `db/branch` is the branch's working set *)
-           match branch_working r b with
-           | Some w => match assoc t (d_schema w) with
-                       | Some cols => ans_eqb a (ARows cols (rows_of t (d_data w)))
-                       | None => is_error a
-                       end
-           | None => is_error a
-           end
-         | _ => match a with ARows _ _ | AHist _ _ => want_commit r v t a | _ => true end   (* refusing is fine; rows must be the right ones *)
-         end
-
-    if revdb_denotes r v then want_commit r v t a
-    else match (norm_base r (fst v), snd v) with
-         | (BBranch b, []) =>                         (* dirty branch: `db/branch` is the branch's working set *)
-           match branch_working r b with
-           | Some w => match assoc t (d_schema w) with
-                       | Some cols => ans_eqb a (ARows cols (rows_of t (d_data w)))
-                       | None => is_error a
-                       end
-           | None => is_error a
-           end
-         | _ => match a with ARows _ _ | AHist _ _ => want_commit r v t a | _ => true end   (* refusing is fine; rows must be the right ones *)
-         end
-     if revdb_denotes r v then want_commit r v t a
-    else match (norm_base r (fst v), snd v) with
-         | (BBranch b, []) =>                         (* dirty branch: `db/branch` is the branch's working set *)
-           match branch_working r b with
-           | Some w => match assoc t (d_schema w) with
-                       | Some cols => ans_eqb a (ARows cols (rows_of t (d_data w)))
-                       | None => is_error a
-                       end
-           | None => is_error a
-           end
-         | _ => match a with ARows _ _ | AHist _ _ => want_commit r v t a | _ => true end   (* refusing is fine; rows must be the right ones *)
-         end
-     if revdb_denotes r v then want_commit r v t a
-    else match (norm_base r (fst v), snd v) with
-         | (BBranch b, []) =>                         (* dirty branch: `db/branch` is the branch's working set *)
-           match branch_working r b with
-           | Some w => match assoc t (d_schema w) with
-                       | Some cols => ans_eqb a (ARows cols (rows_of t (d_data w)))
-                       | None => is_error a
-                       end
-           | None => is_error a
-           end
-         | _ => match a with ARows _ _ | AHist _ _ => want_commit r v t a | _ => true end   (* refusing is fine; rows must be the right ones *)
-         end
-     if revdb_denotes r v then want_commit r v t a
-    else match (norm_base r (fst v), snd v) with
-         | (BBranch b, []) =>                         (* dirty branch: `db/branch` is the branch's working set *)
-           match branch_working r b with
-           | Some w => match assoc t (d_schema w) with
-                       | Some cols => ans_eqb a (ARows cols (rows_of t (d_data w)))
-                       | None => is_error a
-                       end
-           | None => is_error a
-           end
-         | _ => match a with ARows _ _ | AHist _ _ => want_commit r v t a | _ => true end   (* refusing is fine; rows must be the right ones *)
-         end
-e    if revdb_denotes r v then want_commit r v t a
-    else match (norm_base r (fst v), snd v) with
-         | (BBranch b, []) =>                         (* dirty branch: `db/branch` is the branch's working set *)
-           match branch_working r b with
-           | Some w => match assoc t (d_schema w) with
-                       | Some cols => ans_eqb a (ARows cols (rows_of t (d_data w)))
-                       | None => is_error a
-                       end
-           | None => is_error a
-           end
-         | _ => match a with ARows _ _ | AHist _ _ => want_commit r v t a | _ => true end   (* refusing is fine; rows must be the right ones *)
-         end
-x    if revdb_denotes r v then want_commit r v t a
-    else match (norm_base r (fst v), snd v) with
-         | (BBranch b, []) =>                         (* dirty branch: `db/branch` is the branch's working set *)
-           match branch_working r b with
-           | Some w => match assoc t (d_schema w) with
-                       | Some cols => ans_eqb a (ARows cols (rows_of t (d_data w)))
-                       | None => is_error a
-                       end
-           | None => is_error a
-           end
-         | _ => match a with ARows _ _ | AHist _ _ => want_commit r v t a | _ => true end   (* refusing is fine; rows must be the right ones *)
-         end
-a    if revdb_denotes r v then want_commit r v t a
-    else match (norm_base r (fst v), snd v) with
-         | (BBranch b, []) =>                         (* dirty branch: `db/branch` is the branch's working set *)
-           match branch_working r b with
-           | Some w => match assoc t (d_schema w) with
-                       | Some cols => ans_eqb a (ARows cols (rows_of t (d_data w)))
-                       | None => is_error a
-                       end
-           | None => is_error a
-           end
-         | _ => match a with ARows _ _ | AHist _ _ => want_commit r v t a | _ => true end   (* refusing is fine; rows must be the right ones *)
-         end
-c    if revdb_denotes r v then want_commit r v t a
-    else match (norm_base r (fst v), snd v) with
-         | (BBranch b, []) =>                         (* dirty branch: `db/branch` is the branch's working set *)
-           match branch_working r b with
-           | Some w => match assoc t (d_schema w) with
-                       | Some cols => ans_eqb a (ARows cols (rows_of t (d_data w)))
-                       | None => is_error a
-                       end
-           | None => is_error a
-           end
-         | _ => match a with ARows _ _ | AHist _ _ => want_commit r v t a | _ => true end   (* refusing is fine; rows must be the right ones *)
-         end
-t    if revdb_denotes r v then want_commit r v t a
-    else match (norm_base r (fst v), snd v) with
-         | (BBranch b, []) =>                         (* dirty branch: `db/branch` is the branch's working set *)
-           match branch_working r b with
-           | Some w => match assoc t (d_schema w) with
-                       | Some cols => ans_eqb a (ARows cols (rows_of t (d_data w)))
-                       | None => is_error a
-                       end
-           | None => is_error a
-           end
-         | _ => match a with ARows _ _ | AHist _ _ => want_commit r v t a | _ => true end   (* refusing is fine; rows must be the right ones *)
-         end
-l    if revdb_denotes r v then want_commit r v t a
-    else match (norm_base r (fst v), snd v) with
-         | (BBranch b, []) =>                         (* dirty branch: `db/branch` is the branch's working set *)
-           match branch_working r b with
-           | Some w => match assoc t (d_schema w) with
-                       | Some cols => ans_eqb a (ARows cols (rows_of t (d_data w)))
-                       | None => is_error a
-                       end
-           | None => is_error a
-           end
-         | _ => match a with ARows _ _ | AHist _ _ => want_commit r v t a | _ => true end   (* refusing is fine; rows must be the right ones *)
-         end
-y    if revdb_denotes r v then want_commit r v t a
-    else match (norm_base r (fst v), snd v) with
-         | (BBranch b, []) =>                         (* dirty branch: `db/branch` is the branch's working set *)
-           match branch_working r b with
-           | Some w => match assoc t (d_schema w) with
-                       | Some cols => ans_eqb a (ARows cols (rows_of t (d_data w)))
-                       | None => is_error a
-                       end
-           | None => is_error a
-           end
-         | _ => match a with ARows _ _ | AHist _ _ => want_commit r v t a | _ => true end   (* refusing is fine; rows must be the right ones *)
-         end
-     if revdb_denotes r v then want_commit r v t a
-    else match (norm_base r (fst v), snd v) with
-         | (BBranch b, []) =>                         (* dirty branch: `db/branch` is the branch's working set *)
-           match branch_working r b with
-           | Some w => match assoc t (d_schema w) with
-                       | Some cols => ans_eqb a (ARows cols (rows_of t (d_data w)))
-                       | None => is_error a
-                       end
-           | None => is_error a
-           end
-         | _ => match a with ARows _ _ | AHist _ _ => want_commit r v t a | _ => true end   (* refusing is fine; rows must be the right ones *)
-         end
-t    if revdb_denotes r v then want_commit r v t a
-    else match (norm_base r (fst v), snd v) with
-         | (BBranch b, []) =>                         (* dirty branch: `db/branch` is the branch's working set *)
-           match branch_working r b with
-           | Some w => match assoc t (d_schema w) with
-                       | Some cols => ans_eqb a (ARows cols (rows_of t (d_data w)))
-                       | None => is_error a
-                       end
-           | None => is_error a
-           end
-         | _ => match a with ARows _ _ | AHist _ _ => want_commit r v t a | _ => true end   (* refusing is fine; rows must be the right ones *)
-         end
-h    if revdb_denotes r v then want_commit r v t a
-    else match (norm_base r (fst v), snd v) with
-         | (BBranch b, []) =>                         (* dirty branch: `db/branch` is the branch's working set *)
-           match branch_working r b with
-           | Some w => match assoc t (d_schema w) with
-                       | Some cols => ans_eqb a (ARows cols (rows_of t (d_data w)))
-                       | None => is_error a
-                       end
-           | None => is_error a
-           end
-         | _ => match a with ARows _ _ | AHist _ _ => want_commit r v t a | _ => true end   (* refusing is fine; rows must be the right ones *)
-         end
-e    if revdb_denotes r v then want_commit r v t a
-    else match (norm_base r (fst v), snd v) with
-         | (BBranch b, []) =>                         (* dirty branch: `db/branch` is the branch's working set *)
-           match branch_working r b with
-           | Some w => match assoc t (d_schema w) with
-                       | Some cols => ans_eqb a (ARows cols (rows_of t (d_data w)))
-                       | None => is_error a
-                       end
-           | None => is_error a
-           end
-         | _ => match a with ARows _ _ | AHist _ _ => want_commit r v t a | _ => true end   (* refusing is fine; rows must be the right ones *)
-         end
-     if revdb_denotes r v then want_commit r v t a
-    else match (norm_base r (fst v), snd v) with
-         | (BBranch b, []) =>                         (* dirty branch: `db/branch` is the branch's working set *)
-           match branch_working r b with
-           | Some w => match assoc t (d_schema w) with
-                       | Some cols => ans_eqb a (ARows cols (rows_of t (d_data w)))
-                       | None => is_error a
-                       end
-           | None => is_error a
-           end
-         | _ => match a with ARows _ _ | AHist _ _ => want_commit r v t a | _ => true end   (* refusing is fine; rows must be the right ones *)
-         end
-c    if revdb_denotes r v then want_commit r v t a
-    else match (norm_base r (fst v), snd v) with
-         | (BBranch b, []) =>                         (* dirty branch: `db/branch` is the branch's working set *)
-           match branch_working r b with
-           | Some w => match assoc t (d_schema w) with
-                       | Some cols => ans_eqb a (ARows cols (rows_of t (d_data w)))
-                       | None => is_error a
-                       end
-           | None => is_error a
-           end
-         | _ => match a with ARows _ _ | AHist _ _ => want_commit r v t a | _ => true end   (* refusing is fine; rows must be the right ones *)
-         end
-o    if revdb_denotes r v then want_commit r v t a
-    else match (norm_base r (fst v), snd v) with
-         | (BBranch b, []) =>                         (* dirty branch: `db/branch` is the branch's working set *)
-           match branch_working r b with
-           | Some w => match assoc t (d_schema w) with
-                       | Some cols => ans_eqb a (ARows cols (rows_of t (d_data w)))
-                       | None => is_error a
-                       end
-           | None => is_error a
-           end
-         | _ => match a with ARows _ _ | AHist _ _ => want_commit r v t a | _ => true end   (* refusing is fine; rows must be the right ones *)
-         end
-m    if revdb_denotes r v then want_commit r v t a
-    else match (norm_base r (fst v), snd v) with
-         | (BBranch b, []) =>                         (* dirty branch: `db/branch` is the branch's working set *)
-           match branch_working r b with
-           | Some w => match assoc t (d_schema w) with
-                       | Some cols => ans_eqb a (ARows cols (rows_of t (d_data w)))
-                       | None => is_error a
-                       end
-           | None => is_error a
-           end
-         | _ => match a with ARows _ _ | AHist _ _ => want_commit r v t a | _ => true end   (* refusing is fine; rows must be the right ones *)
-         end
-m    if revdb_denotes r v then want_commit r v t a
-    else match (norm_base r (fst v), snd v) with
-         | (BBranch b, []) =>                         (* dirty branch: `db/branch` is the branch's working set *)
-           match branch_working r b with
-           | Some w => match assoc t (d_schema w) with
-                       | Some cols => ans_eqb a (ARows cols (rows_of t (d_data w)))
-                       | None => is_error a
-                       end
-           | None => is_error a
-           end
-         | _ => match a with ARows _ _ | AHist _ _ => want_commit r v t a | _ => true end   (* refusing is fine; rows must be the right ones *)
-         end
-i    if revdb_denotes r v then want_commit r v t a
-    else match (norm_base r (fst v), snd v) with
-         | (BBranch b, []) =>                         (* dirty branch: `db/branch` is the branch's working set *)
-           match branch_working r b with
-           | Some w => match assoc t (d_schema w) with
-                       | Some cols => ans_eqb a (ARows cols (rows_of t (d_data w)))
-                       | None => is_error a
-                       end
-           | None => is_error a
-           end
-         | _ => match a with ARows _ _ | AHist _ _ => want_commit r v t a | _ => true end   (* refusing is fine; rows must be the right ones *)
-         end
-t    if revdb_denotes r v then want_commit r v t a
-    else match (norm_base r (fst v), snd v) with
-         | (BBranch b, []) =>                         (* dirty branch: `db/branch` is the branch's working set *)
-           match branch_working r b with
-           | Some w => match assoc t (d_schema w) with
-                       | Some cols => ans_eqb a (ARows cols (rows_of t (d_data w)))
-                       | None => is_error a
-                       end
-           | None => is_error a
-           end
-         | _ => match a with ARows _ _ | AHist _ _ => want_commit r v t a | _ => true end   (* refusing is fine; rows must be the right ones *)
-         end
-s    if revdb_denotes r v then want_commit r v t a
-    else match (norm_base r (fst v), snd v) with
-         | (BBranch b, []) =>                         (* dirty branch: `db/branch` is the branch's working set *)
-           match branch_working r b with
-           | Some w => match assoc t (d_schema w) with
-                       | Some cols => ans_eqb a (ARows cols (rows_of t (d_data w)))
-                       | None => is_error a
-                       end
-           | None => is_error a
-           end
-         | _ => match a with ARows _ _ | AHist _ _ => want_commit r v t a | _ => true end   (* refusing is fine; rows must be the right ones *)
-         end
-     if revdb_denotes r v then want_commit r v t a
-    else match (norm_base r (fst v), snd v) with
-         | (BBranch b, []) =>                         (* dirty branch: `db/branch` is the branch's working set *)
-           match branch_working r b with
-           | Some w => match assoc t (d_schema w) with
-                       | Some cols => ans_eqb a (ARows cols (rows_of t (d_data w)))
-                       | None => is_error a
-                       end
-           | None => is_error a
-           end
-         | _ => match a with ARows _ _ | AHist _ _ => want_commit r v t a | _ => true end   (* refusing is fine; rows must be the right ones *)
-         end
-r    if revdb_denotes r v then want_commit r v t a
-    else match (norm_base r (fst v), snd v) with
-         | (BBranch b, []) =>                         (* dirty branch: `db/branch` is the branch's working set *)
-           match branch_working r b with
-           | Some w => match assoc t (d_schema w) with
-                       | Some cols => ans_eqb a (ARows cols (rows_of t (d_data w)))
-                       | None => is_error a
-                       end
-           | None => is_error a
-           end
-         | _ => match a with ARows _ _ | AHist _ _ => want_commit r v t a | _ => true end   (* refusing is fine; rows must be the right ones *)
-         end
-e    if revdb_denotes r v then want_commit r v t a
-    else match (norm_base r (fst v), snd v) with
-         | (BBranch b, []) =>                         (* dirty branch: `db/branch` is the branch's working set *)
-           match branch_working r b with
-           | Some w => match assoc t (d_schema w) with
-                       | Some cols => ans_eqb a (ARows cols (rows_of t (d_data w)))
-                       | None => is_error a
-                       end
-           | None => is_error a
-           end
-         | _ => match a with ARows _ _ | AHist _ _ => want_commit r v t a | _ => true end   (* refusing is fine; rows must be the right ones *)
-         end
-a    if revdb_denotes r v then want_commit r v t a
-    else match (norm_base r (fst v), snd v) with
-         | (BBranch b, []) =>                         (* dirty branch: `db/branch` is the branch's working set *)
-           match branch_working r b with
-           | Some w => match assoc t (d_schema w) with
-                       | Some cols => ans_eqb a (ARows cols (rows_of t (d_data w)))
-                       | None => is_error a
-                       end
-           | None => is_error a
-           end
-         | _ => match a with ARows _ _ | AHist _ _ => want_commit r v t a | _ => true end   (* refusing is fine; rows must be the right ones *)
-         end
-c    if revdb_denotes r v then want_commit r v t a
-    else match (norm_base r (fst v), snd v) with
-         | (BBranch b, []) =>                         (* dirty branch: `db/branch` is the branch's working set *)
-           match branch_working r b with
-           | Some w => match assoc t (d_schema w) with
-                       | Some cols => ans_eqb a (ARows cols (rows_of t (d_data w)))
-                       | None => is_error a
-                       end
-           | None => is_error a
-           end
-         | _ => match a with ARows _ _ | AHist _ _ => want_commit r v t a | _ => true end   (* refusing is fine; rows must be the right ones *)
-         end
-h    if revdb_denotes r v then want_commit r v t a
-    else match (norm_base r (fst v), snd v) with
-         | (BBranch b, []) =>                         (* dirty branch: `db/branch` is the branch's working set *)
-           match branch_working r b with
-           | Some w => match assoc t (d_schema w) with
-                       | Some cols => ans_eqb a (ARows cols (rows_of t (d_data w)))
-                       | None => is_error a
-                       end
-           | None => is_error a
-           end
-         | _ => match a with ARows _ _ | AHist _ _ => want_commit r v t a | _ => true end   (* refusing is fine; rows must be the right ones *)
-         end
-a    if revdb_denotes r v then want_commit r v t a
-    else match (norm_base r (fst v), snd v) with
-         | (BBranch b, []) =>                         (* dirty branch: `db/branch` is the branch's working set *)
-           match branch_working r b with
-           | Some w => match assoc t (d_schema w) with
-                       | Some cols => ans_eqb a (ARows cols (rows_of t (d_data w)))
-                       | None => is_error a
-                       end
-           | None => is_error a
-           end
-         | _ => match a with ARows _ _ | AHist _ _ => want_commit r v t a | _ => true end   (* refusing is fine; rows must be the right ones *)
-         end
-b    if revdb_denotes r v then want_commit r v t a
-    else match (norm_base r (fst v), snd v) with
-         | (BBranch b, []) =>                         (* dirty branch: `db/branch` is the branch's working set *)
-           match branch_working r b with
-           | Some w => match assoc t (d_schema w) with
-                       | Some cols => ans_eqb a (ARows cols (rows_of t (d_data w)))
-                       | None => is_error a
-                       end
-           | None => is_error a
-           end
-         | _ => match a with ARows _ _ | AHist _ _ => want_commit r v t a | _ => true end   (* refusing is fine; rows must be the right ones *)
-         end
-l    if revdb_denotes r v then want_commit r v t a
-    else match (norm_base r (fst v), snd v) with
-         | (BBranch b, []) =>                         (* dirty branch: `db/branch` is the branch's working set *)
-           match branch_working r b with
-           | Some w => match assoc t (d_schema w) with
-                       | Some cols => ans_eqb a (ARows cols (rows_of t (d_data w)))
-                       | None => is_error a
-                       end
-           | None => is_error a
-           end
-         | _ => match a with ARows _ _ | AHist _ _ => want_commit r v t a | _ => true end   (* refusing is fine; rows must be the right ones *)
-         end
-e    if revdb_denotes r v then want_commit r v t a
-    else match (norm_base r (fst v), snd v) with
-         | (BBranch b, []) =>                         (* dirty branch: `db/branch` is the branch's working set *)
-           match branch_working r b with
-           | Some w => match assoc t (d_schema w) with
-                       | Some cols => ans_eqb a (ARows cols (rows_of t (d_data w)))
-                       | None => is_error a
-                       end
-           | None => is_error a
-           end
-         | _ => match a with ARows _ _ | AHist _ _ => want_commit r v t a | _ => true end   (* refusing is fine; rows must be the right ones *)
-         end
-     if revdb_denotes r v then want_commit r v t a
-    else match (norm_base r (fst v), snd v) with
-         | (BBranch b, []) =>                         (* dirty branch: `db/branch` is the branch's working set *)
-           match branch_working r b with
-           | Some w => match assoc t (d_schema w) with
-                       | Some cols => ans_eqb a (ARows cols (rows_of t (d_data w)))
-                       | None => is_error a
-                       end
-           | None => is_error a
-           end
-         | _ => match a with ARows _ _ | AHist _ _ => want_commit r v t a | _ => true end   (* refusing is fine; rows must be the right ones *)
-         end
-f    if revdb_denotes r v then want_commit r v t a
-    else match (norm_base r (fst v), snd v) with
-         | (BBranch b, []) =>                         (* dirty branch: `db/branch` is the branch's working set *)
-           match branch_working r b with
-           | Some w => match assoc t (d_schema w) with
-                       | Some cols => ans_eqb a (ARows cols (rows_of t (d_data w)))
-                       | None => is_error a
-                       end
-           | None => is_error a
-           end
-         | _ => match a with ARows _ _ | AHist _ _ => want_commit r v t a | _ => true end   (* refusing is fine; rows must be the right ones *)
-         end
-r    if revdb_denotes r v then want_commit r v t a
-    else match (norm_base r (fst v), snd v) with
-         | (BBranch b, []) =>                         (* dirty branch: `db/branch` is the branch's working set *)
-           match branch_working r b with
-           | Some w => match assoc t (d_schema w) with
-                       | Some cols => ans_eqb a (ARows cols (rows_of t (d_data w)))
-                       | None => is_error a
-                       end
-           | None => is_error a
-           end
-         | _ => match a with ARows _ _ | AHist _ _ => want_commit r v t a | _ => true end   (* refusing is fine; rows must be the right ones *)
-         end
-o    if revdb_denotes r v then want_commit r v t a
-    else match (norm_base r (fst v), snd v) with
-         | (BBranch b, []) =>                         (* dirty branch: `db/branch` is the branch's working set *)
-           match branch_working r b with
-           | Some w => match assoc t (d_schema w) with
-                       | Some cols => ans_eqb a (ARows cols (rows_of t (d_data w)))
-                       | None => is_error a
-                       end
-           | None => is_error a
-           end
-         | _ => match a with ARows _ _ | AHist _ _ => want_commit r v t a | _ => true end   (* refusing is fine; rows must be the right ones *)
-         end
-m    if revdb_denotes r v then want_commit r v t a
-    else match (norm_base r (fst v), snd v) with
-         | (BBranch b, []) =>                         (* dirty branch: `db/branch` is the branch's working set *)
-           match branch_working r b with
-           | Some w => match assoc t (d_schema w) with
-                       | Some cols => ans_eqb a (ARows cols (rows_of t (d_data w)))
-                       | None => is_error a
-                       end
-           | None => is_error a
-           end
-         | _ => match a with ARows _ _ | AHist _ _ => want_commit r v t a | _ => true end   (* refusing is fine; rows must be the right ones *)
-         end
-     if revdb_denotes r v then want_commit r v t a
-    else match (norm_base r (fst v), snd v) with
-         | (BBranch b, []) =>                         (* dirty branch: `db/branch` is the branch's working set *)
-           match branch_working r b with
-           | Some w => match assoc t (d_schema w) with
-                       | Some cols => ans_eqb a (ARows cols (rows_of t (d_data w)))
-                       | None => is_error a
-                       end
-           | None => is_error a
-           end
-         | _ => match a with ARows _ _ | AHist _ _ => want_commit r v t a | _ => true end   (* refusing is fine; rows must be the right ones *)
-         end
-H    if revdb_denotes r v then want_commit r v t a
-    else match (norm_base r (fst v), snd v) with
-         | (BBranch b, []) =>                         (* dirty branch: `db/branch` is the branch's working set *)
-           match branch_working r b with
-           | Some w => match assoc t (d_schema w) with
-                       | Some cols => ans_eqb a (ARows cols (rows_of t (d_data w)))
-                       | None => is_error a
-                       end
-           | None => is_error a
-           end
-         | _ => match a with ARows _ _ | AHist _ _ => want_commit r v t a | _ => true end   (* refusing is fine; rows must be the right ones *)
-         end
-E    if revdb_denotes r v then want_commit r v t a
-    else match (norm_base r (fst v), snd v) with
-         | (BBranch b, []) =>                         (* dirty branch: `db/branch` is the branch's working set *)
-           match branch_working r b with
-           | Some w => match assoc t (d_schema w) with
-                       | Some cols => ans_eqb a (ARows cols (rows_of t (d_data w)))
-                       | None => is_error a
-                       end
-           | None => is_error a
-           end
-         | _ => match a with ARows _ _ | AHist _ _ => want_commit r v t a | _ => true end   (* refusing is fine; rows must be the right ones *)
-         end
-A    if revdb_denotes r v then want_commit r v t a
-    else match (norm_base r (fst v), snd v) with
-         | (BBranch b, []) =>                         (* dirty branch: `db/branch` is the branch's working set *)
-           match branch_working r b with
-           | Some w => match assoc t (d_schema w) with
-                       | Some cols => ans_eqb a (ARows cols (rows_of t (d_data w)))
-                       | None => is_error a
-                       end
-           | None => is_error a
-           end
-         | _ => match a with ARows _ _ | AHist _ _ => want_commit r v t a | _ => true end   (* refusing is fine; rows must be the right ones *)
-         end
-D    if revdb_denotes r v then want_commit r v t a
-    else match (norm_base r (fst v), snd v) with
-         | (BBranch b, []) =>                         (* dirty branch: `db/branch` is the branch's working set *)
-           match branch_working r b with
-           | Some w => match assoc t (d_schema w) with
-                       | Some cols => ans_eqb a (ARows cols (rows_of t (d_data w)))
-                       | None => is_error a
-                       end
-           | None => is_error a
-           end
-         | _ => match a with ARows _ _ | AHist _ _ => want_commit r v t a | _ => true end   (* refusing is fine; rows must be the right ones *)
-         end
-,    if revdb_denotes r v then want_commit r v t a
-    else match (norm_base r (fst v), snd v) with
-         | (BBranch b, []) =>                         (* dirty branch: `db/branch` is the branch's working set *)
-           match branch_working r b with
-           | Some w => match assoc t (d_schema w) with
-                       | Some cols => ans_eqb a (ARows cols (rows_of t (d_data w)))
-                       | None => is_error a
-                       end
-           | None => is_error a
-           end
-         | _ => match a with ARows _ _ | AHist _ _ => want_commit r v t a | _ => true end   (* refusing is fine; rows must be the right ones *)
-         end
-     if revdb_denotes r v then want_commit r v t a
-    else match (norm_base r (fst v), snd v) with
-         | (BBranch b, []) =>                         (* dirty branch: `db/branch` is the branch's working set *)
-           match branch_working r b with
-           | Some w => match assoc t (d_schema w) with
-                       | Some cols => ans_eqb a (ARows cols (rows_of t (d_data w)))
-                       | None => is_error a
-                       end
-           | None => is_error a
-           end
-         | _ => match a with ARows _ _ | AHist _ _ => want_commit r v t a | _ => true end   (* refusing is fine; rows must be the right ones *)
-         end
-e    if revdb_denotes r v then want_commit r v t a
-    else match (norm_base r (fst v), snd v) with
-         | (BBranch b, []) =>                         (* dirty branch: `db/branch` is the branch's working set *)
-           match branch_working r b with
-           | Some w => match assoc t (d_schema w) with
-                       | Some cols => ans_eqb a (ARows cols (rows_of t (d_data w)))
-                       | None => is_error a
-                       end
-           | None => is_error a
-           end
-         | _ => match a with ARows _ _ | AHist _ _ => want_commit r v t a | _ => true end   (* refusing is fine; rows must be the right ones *)
-         end
-a    if revdb_denotes r v then want_commit r v t a
-    else match (norm_base r (fst v), snd v) with
-         | (BBranch b, []) =>                         (* dirty branch: `db/branch` is the branch's working set *)
-           match branch_working r b with
-           | Some w => match assoc t (d_schema w) with
-                       | Some cols => ans_eqb a (ARows cols (rows_of t (d_data w)))
-                       | None => is_error a
-                       end
-           | None => is_error a
-           end
-         | _ => match a with ARows _ _ | AHist _ _ => want_commit r v t a | _ => true end   (* refusing is fine; rows must be the right ones *)
-         end
-c    if revdb_denotes r v then want_commit r v t a
-    else match (norm_base r (fst v), snd v) with
-         | (BBranch b, []) =>                         (* dirty branch: `db/branch` is the branch's working set *)
-           match branch_working r b with
-           | Some w => match assoc t (d_schema w) with
-                       | Some cols => ans_eqb a (ARows cols (rows_of t (d_data w)))
-                       | None => is_error a
-                       end
-           | None => is_error a
-           end
-         | _ => match a with ARows _ _ | AHist _ _ => want_commit r v t a | _ => true end   (* refusing is fine; rows must be the right ones *)
-         end
-h    if revdb_denotes r v then want_commit r v t a
-    else match (norm_base r (fst v), snd v) with
-         | (BBranch b, []) =>                         (* dirty branch: `db/branch` is the branch's working set *)
-           match branch_working r b with
-           | Some w => match assoc t (d_schema w) with
-                       | Some cols => ans_eqb a (ARows cols (rows_of t (d_data w)))
-                       | None => is_error a
-                       end
-           | None => is_error a
-           end
-         | _ => match a with ARows _ _ | AHist _ _ => want_commit r v t a | _ => true end   (* refusing is fine; rows must be the right ones *)
-         end
-     if revdb_denotes r v then want_commit r v t a
-    else match (norm_base r (fst v), snd v) with
-         | (BBranch b, []) =>                         (* dirty branch: `db/branch` is the branch's working set *)
-           match branch_working r b with
-           | Some w => match assoc t (d_schema w) with
-                       | Some cols => ans_eqb a (ARows cols (rows_of t (d_data w)))
-                       | None => is_error a
-                       end
-           | None => is_error a
-           end
-         | _ => match a with ARows _ _ | AHist _ _ => want_commit r v t a | _ => true end   (* refusing is fine; rows must be the right ones *)
-         end
-o    if revdb_denotes r v then want_commit r v t a
-    else match (norm_base r (fst v), snd v) with
-         | (BBranch b, []) =>                         (* dirty branch: `db/branch` is the branch's working set *)
-           match branch_working r b with
-           | Some w => match assoc t (d_schema w) with
-                       | Some cols => ans_eqb a (ARows cols (rows_of t (d_data w)))
-                       | None => is_error a
-                       end
-           | None => is_error a
-           end
-         | _ => match a with ARows _ _ | AHist _ _ => want_commit r v t a | _ => true end   (* refusing is fine; rows must be the right ones *)
-         end
-n    if revdb_denotes r v then want_commit r v t a
-    else match (norm_base r (fst v), snd v) with
-         | (BBranch b, []) =>                         (* dirty branch: `db/branch` is the branch's working set *)
-           match branch_working r b with
-           | Some w => match assoc t (d_schema w) with
-                       | Some cols => ans_eqb a (ARows cols (rows_of t (d_data w)))
-                       | None => is_error a
-                       end
-           | None => is_error a
-           end
-         | _ => match a with ARows _ _ | AHist _ _ => want_commit r v t a | _ => true end   (* refusing is fine; rows must be the right ones *)
-         end
-c    if revdb_denotes r v then want_commit r v t a
-    else match (norm_base r (fst v), snd v) with
-         | (BBranch b, []) =>                         (* dirty branch: `db/branch` is the branch's working set *)
-           match branch_working r b with
-           | Some w => match assoc t (d_schema w) with
-                       | Some cols => ans_eqb a (ARows cols (rows_of t (d_data w)))
-                       | None => is_error a
-                       end
-           | None => is_error a
-           end
-         | _ => match a with ARows _ _ | AHist _ _ => want_commit r v t a | _ => true end   (* refusing is fine; rows must be the right ones *)
-         end
-e    if revdb_denotes r v then want_commit r v t a
-    else match (norm_base r (fst v), snd v) with
-         | (BBranch b, []) =>                         (* dirty branch: `db/branch` is the branch's working set *)
-           match branch_working r b with
-           | Some w => match assoc t (d_schema w) with
-                       | Some cols => ans_eqb a (ARows cols (rows_of t (d_data w)))
-                       | None => is_error a
-                       end
-           | None => is_error a
-           end
-         | _ => match a with ARows _ _ | AHist _ _ => want_commit r v t a | _ => true end   (* refusing is fine; rows must be the right ones *)
-         end
-.    if revdb_denotes r v then want_commit r v t a
-    else match (norm_base r (fst v), snd v) with
-         | (BBranch b, []) =>                         (* dirty branch: `db/branch` is the branch's working set *)
-           match branch_working r b with
-           | Some w => match assoc t (d_schema w) with
-                       | Some cols => ans_eqb a (ARows cols (rows_of t (d_data w)))
-                       | None => is_error a
-                       end
-           | None => is_error a
-           end
-         | _ => match a with ARows _ _ | AHist _ _ => want_commit r v t a | _ => true end   (* refusing is fine; rows must be the right ones *)
-         end
-     if revdb_denotes r v then want_commit r v t a
-    else match (norm_base r (fst v), snd v) with
-         | (BBranch b, []) =>                         (* dirty branch: `db/branch` is the branch's working set *)
-           match branch_working r b with
-           | Some w => match assoc t (d_schema w) with
-                       | Some cols => ans_eqb a (ARows cols (rows_of t (d_data w)))
-                       | None => is_error a
-                       end
-           | None => is_error a
-           end
-         | _ => match a with ARows _ _ | AHist _ _ => want_commit r v t a | _ => true end   (* refusing is fine; rows must be the right ones *)
-         end
-*    if revdb_denotes r v then want_commit r v t a
-    else match (norm_base r (fst v), snd v) with
-         | (BBranch b, []) =>                         (* dirty branch: `db/branch` is the branch's working set *)
-           match branch_working r b with
-           | Some w => match assoc t (d_schema w) with
-                       | Some cols => ans_eqb a (ARows cols (rows_of t (d_data w)))
-                       | None => is_error a
-                       end
-           | None => is_error a
-           end
-         | _ => match a with ARows _ _ | AHist _ _ => want_commit r v t a | _ => true end   (* refusing is fine; rows must be the right ones *)
-         end
-)    if revdb_denotes r v then want_commit r v t a
-    else match (norm_base r (fst v), snd v) with
-         | (BBranch b, []) =>                         (* dirty branch: `db/branch` is the branch's working set *)
-           match branch_working r b with
-           | Some w => match assoc t (d_schema w) with
-                       | Some cols => ans_eqb a (ARows cols (rows_of t (d_data w)))
-                       | None => is_error a
-                       end
-           | None => is_error a
-           end
-         | _ => match a with ARows _ _ | AHist _ _ => want_commit r v t a | _ => true end   (* refusing is fine; rows must be the right ones *)
-         end
-
-    if revdb_denotes r v then want_commit r v t a
-    else match (norm_base r (fst v), snd v) with
-         | (BBranch b, []) =>                         (* dirty branch: `db/branch` is the branch's working set *)
-           match branch_working r b with
-           | Some w => match assoc t (d_schema w) with
-                       | Some cols => ans_eqb a (ARows cols (rows_of t (d_data w)))
-                       | None => is_error a
-                       end
-           | None => is_error a
-           end
-         | _ => match a with ARows _ _ | AHist _ _ => want_commit r v t a | _ => true end   (* refusing is fine; rows must be the right ones *)
-         end
-D    if revdb_denotes r v then want_commit r v t a
-    else match (norm_base r (fst v), snd v) with
-         | (BBranch b, []) =>                         (* dirty branch: `db/branch` is the branch's working set *)
-           match branch_working r b with
-           | Some w => match assoc t (d_schema w) with
-                       | Some cols => ans_eqb a (ARows cols (rows_of t (d_data w)))
-                       | None => is_error a
-                       end
-           | None => is_error a
-           end
-         | _ => match a with ARows _ _ | AHist _ _ => want_commit r v t a | _ => true end   (* refusing is fine; rows must be the right ones *)
-         end
-e    if revdb_denotes r v then want_commit r v t a
-    else match (norm_base r (fst v), snd v) with
-         | (BBranch b, []) =>                         (* dirty branch: `db/branch` is the branch's working set *)
-           match branch_working r b with
-           | Some w => match assoc t (d_schema w) with
-                       | Some cols => ans_eqb a (ARows cols (rows_of t (d_data w)))
-                       | None => is_error a
-                       end
-           | None => is_error a
-           end
-         | _ => match a with ARows _ _ | AHist _ _ => want_commit r v t a | _ => true end   (* refusing is fine; rows must be the right ones *)
-         end
-f    if revdb_denotes r v then want_commit r v t a
-    else match (norm_base r (fst v), snd v) with
-         | (BBranch b, []) =>                         (* dirty branch: `db/branch` is the branch's working set *)
-           match branch_working r b with
-           | Some w => match assoc t (d_schema w) with
-                       | Some cols => ans_eqb a (ARows cols (rows_of t (d_data w)))
-                       | None => is_error a
-                       end
-           | None => is_error a
-           end
-         | _ => match a with ARows _ _ | AHist _ _ => want_commit r v t a | _ => true end   (* refusing is fine; rows must be the right ones *)
-         end
-i    if revdb_denotes r v then want_commit r v t a
-    else match (norm_base r (fst v), snd v) with
-         | (BBranch b, []) =>                         (* dirty branch: `db/branch` is the branch's working set *)
-           match branch_working r b with
-           | Some w => match assoc t (d_schema w) with
-                       | Some cols => ans_eqb a (ARows cols (rows_of t (d_data w)))
-                       | None => is_error a
-                       end
-           | None => is_error a
-           end
-         | _ => match a with ARows _ _ | AHist _ _ => want_commit r v t a | _ => true end   (* refusing is fine; rows must be the right ones *)
-         end
-n    if revdb_denotes r v then want_commit r v t a
-    else match (norm_base r (fst v), snd v) with
-         | (BBranch b, []) =>                         (* dirty branch: `db/branch` is the branch's working set *)
-           match branch_working r b with
-           | Some w => match assoc t (d_schema w) with
-                       | Some cols => ans_eqb a (ARows cols (rows_of t (d_data w)))
-                       | None => is_error a
-                       end
-           | None => is_error a
-           end
-         | _ => match a with ARows _ _ | AHist _ _ => want_commit r v t a | _ => true end   (* refusing is fine; rows must be the right ones *)
-         end
-i    if revdb_denotes r v then want_commit r v t a
-    else match (norm_base r (fst v), snd v) with
-         | (BBranch b, []) =>                         (* dirty branch: `db/branch` is the branch's working set *)
-           match branch_working r b with
-           | Some w => match assoc t (d_schema w) with
-                       | Some cols => ans_eqb a (ARows cols (rows_of t (d_data w)))
-                       | None => is_error a
-                       end
-           | None => is_error a
-           end
-         | _ => match a with ARows _ _ | AHist _ _ => want_commit r v t a | _ => true end   (* refusing is fine; rows must be the right ones *)
-         end
-t    if revdb_denotes r v then want_commit r v t a
-    else match (norm_base r (fst v), snd v) with
-         | (BBranch b, []) =>                         (* dirty branch: `db/branch` is the branch's working set *)
-           match branch_working r b with
-           | Some w => match assoc t (d_schema w) with
-                       | Some cols => ans_eqb a (ARows cols (rows_of t (d_data w)))
-                       | None => is_error a
-                       end
-           | None => is_error a
-           end
-         | _ => match a with ARows _ _ | AHist _ _ => want_commit r v t a | _ => true end   (* refusing is fine; rows must be the right ones *)
-         end
-i    if revdb_denotes r v then want_commit r v t a
-    else match (norm_base r (fst v), snd v) with
-         | (BBranch b, []) =>                         (* dirty branch: `db/branch` is the branch's working set *)
-           match branch_working r b with
-           | Some w => match assoc t (d_schema w) with
-                       | Some cols => ans_eqb a (ARows cols (rows_of t (d_data w)))
-                       | None => is_error a
-                       end
-           | None => is_error a
-           end
-         | _ => match a with ARows _ _ | AHist _ _ => want_commit r v t a | _ => true end   (* refusing is fine; rows must be the right ones *)
-         end
-o    if revdb_denotes r v then want_commit r v t a
-    else match (norm_base r (fst v), snd v) with
-         | (BBranch b, []) =>                         (* dirty branch: `db/branch` is the branch's working set *)
-           match branch_working r b with
-           | Some w => match assoc t (d_schema w) with
-                       | Some cols => ans_eqb a (ARows cols (rows_of t (d_data w)))
-                       | None => is_error a
-                       end
-           | None => is_error a
-           end
-         | _ => match a with ARows _ _ | AHist _ _ => want_commit r v t a | _ => true end   (* refusing is fine; rows must be the right ones *)
-         end
-n    if revdb_denotes r v then want_commit r v t a
-    else match (norm_base r (fst v), snd v) with
-         | (BBranch b, []) =>                         (* dirty branch: `db/branch` is the branch's working set *)
-           match branch_working r b with
-           | Some w => match assoc t (d_schema w) with
-                       | Some cols => ans_eqb a (ARows cols (rows_of t (d_data w)))
-                       | None => is_error a
-                       end
-           | None => is_error a
-           end
-         | _ => match a with ARows _ _ | AHist _ _ => want_commit r v t a | _ => true end   (* refusing is fine; rows must be the right ones *)
-         end
-     if revdb_denotes r v then want_commit r v t a
-    else match (norm_base r (fst v), snd v) with
-         | (BBranch b, []) =>                         (* dirty branch: `db/branch` is the branch's working set *)
-           match branch_working r b with
-           | Some w => match assoc t (d_schema w) with
-                       | Some cols => ans_eqb a (ARows cols (rows_of t (d_data w)))
-                       | None => is_error a
-                       end
-           | None => is_error a
-           end
-         | _ => match a with ARows _ _ | AHist _ _ => want_commit r v t a | _ => true end   (* refusing is fine; rows must be the right ones *)
-         end
-w    if revdb_denotes r v then want_commit r v t a
-    else match (norm_base r (fst v), snd v) with
-         | (BBranch b, []) =>                         (* dirty branch: `db/branch` is the branch's working set *)
-           match branch_working r b with
-           | Some w => match assoc t (d_schema w) with
-                       | Some cols => ans_eqb a (ARows cols (rows_of t (d_data w)))
-                       | None => is_error a
-                       end
-           | None => is_error a
-           end
-         | _ => match a with ARows _ _ | AHist _ _ => want_commit r v t a | _ => true end   (* refusing is fine; rows must be the right ones *)
-         end
-a    if revdb_denotes r v then want_commit r v t a
-    else match (norm_base r (fst v), snd v) with
-         | (BBranch b, []) =>                         (* dirty branch: `db/branch` is the branch's working set *)
-           match branch_working r b with
-           | Some w => match assoc t (d_schema w) with
-                       | Some cols => ans_eqb a (ARows cols (rows_of t (d_data w)))
-                       | None => is_error a
-                       end
-           | None => is_error a
-           end
-         | _ => match a with ARows _ _ | AHist _ _ => want_commit r v t a | _ => true end   (* refusing is fine; rows must be the right ones *)
-         end
-n    if revdb_denotes r v then want_commit r v t a
-    else match (norm_base r (fst v), snd v) with
-         | (BBranch b, []) =>                         (* dirty branch: `db/branch` is the branch's working set *)
-           match branch_working r b with
-           | Some w => match assoc t (d_schema w) with
-                       | Some cols => ans_eqb a (ARows cols (rows_of t (d_data w)))
-                       | None => is_error a
-                       end
-           | None => is_error a
-           end
-         | _ => match a with ARows _ _ | AHist _ _ => want_commit r v t a | _ => true end   (* refusing is fine; rows must be the right ones *)
-         end
-t    if revdb_denotes r v then want_commit r v t a
-    else match (norm_base r (fst v), snd v) with
-         | (BBranch b, []) =>                         (* dirty branch: `db/branch` is the branch's working set *)
-           match branch_working r b with
-           | Some w => match assoc t (d_schema w) with
-                       | Some cols => ans_eqb a (ARows cols (rows_of t (d_data w)))
-                       | None => is_error a
-                       end
-           | None => is_error a
-           end
-         | _ => match a with ARows _ _ | AHist _ _ => want_commit r v t a | _ => true end   (* refusing is fine; rows must be the right ones *)
-         end
-_    if revdb_denotes r v then want_commit r v t a
-    else match (norm_base r (fst v), snd v) with
-         | (BBranch b, []) =>                         (* dirty branch: `db/branch` is the branch's working set *)
-           match branch_working r b with
-           | Some w => match assoc t (d_schema w) with
-                       | Some cols => ans_eqb a (ARows cols (rows_of t (d_data w)))
-                       | None => is_error a
-                       end
-           | None => is_error a
-           end
-         | _ => match a with ARows _ _ | AHist _ _ => want_commit r v t a | _ => true end   (* refusing is fine; rows must be the right ones *)
-         end
-c    if revdb_denotes r v then want_commit r v t a
-    else match (norm_base r (fst v), snd v) with
-         | (BBranch b, []) =>                         (* dirty branch: `db/branch` is the branch's working set *)
-           match branch_working r b with
-           | Some w => match assoc t (d_schema w) with
-                       | Some cols => ans_eqb a (ARows cols (rows_of t (d_data w)))
-                       | None => is_error a
-                       end
-           | None => is_error a
-           end
-         | _ => match a with ARows _ _ | AHist _ _ => want_commit r v t a | _ => true end   (* refusing is fine; rows must be the right ones *)
-         end
-o    if revdb_denotes r v then want_commit r v t a
-    else match (norm_base r (fst v), snd v) with
-         | (BBranch b, []) =>                         (* dirty branch: `db/branch` is the branch's working set *)
-           match branch_working r b with
-           | Some w => match assoc t (d_schema w) with
-                       | Some cols => ans_eqb a (ARows cols (rows_of t (d_data w)))
-                       | None => is_error a
-                       end
-           | None => is_error a
-           end
-         | _ => match a with ARows _ _ | AHist _ _ => want_commit r v t a | _ => true end   (* refusing is fine; rows must be the right ones *)
-         end
-m    if revdb_denotes r v then want_commit r v t a
-    else match (norm_base r (fst v), snd v) with
-         | (BBranch b, []) =>                         (* dirty branch: `db/branch` is the branch's working set *)
-           match branch_working r b with
-           | Some w => match assoc t (d_schema w) with
-                       | Some cols => ans_eqb a (ARows cols (rows_of t (d_data w)))
-                       | None => is_error a
-                       end
-           | None => is_error a
-           end
-         | _ => match a with ARows _ _ | AHist _ _ => want_commit r v t a | _ => true end   (* refusing is fine; rows must be the right ones *)
-         end
-m    if revdb_denotes r v then want_commit r v t a
-    else match (norm_base r (fst v), snd v) with
-         | (BBranch b, []) =>                         (* dirty branch: `db/branch` is the branch's working set *)
-           match branch_working r b with
-           | Some w => match assoc t (d_schema w) with
-                       | Some cols => ans_eqb a (ARows cols (rows_of t (d_data w)))
-                       | None => is_error a
-                       end
-           | None => is_error a
-           end
-         | _ => match a with ARows _ _ | AHist _ _ => want_commit r v t a | _ => true end   (* refusing is fine; rows must be the right ones *)
-         end
-i    if revdb_denotes r v then want_commit r v t a
-    else match (norm_base r (fst v), snd v) with
-         | (BBranch b, []) =>                         (* dirty branch: `db/branch` is the branch's working set *)
-           match branch_working r b with
-           | Some w => match assoc t (d_schema w) with
-                       | Some cols => ans_eqb a (ARows cols (rows_of t (d_data w)))
-                       | None => is_error a
-                       end
-           | None => is_error a
-           end
-         | _ => match a with ARows _ _ | AHist _ _ => want_commit r v t a | _ => true end   (* refusing is fine; rows must be the right ones *)
-         end
-t    if revdb_denotes r v then want_commit r v t a
-    else match (norm_base r (fst v), snd v) with
-         | (BBranch b, []) =>                         (* dirty branch: `db/branch` is the branch's working set *)
-           match branch_working r b with
-           | Some w => match assoc t (d_schema w) with
-                       | Some cols => ans_eqb a (ARows cols (rows_of t (d_data w)))
-                       | None => is_error a
-                       end
-           | None => is_error a
-           end
-         | _ => match a with ARows _ _ | AHist _ _ => want_commit r v t a | _ => true end   (* refusing is fine; rows must be the right ones *)
-         end
-     if revdb_denotes r v then want_commit r v t a
-    else match (norm_base r (fst v), snd v) with
-         | (BBranch b, []) =>                         (* dirty branch: `db/branch` is the branch's working set *)
-           match branch_working r b with
-           | Some w => match assoc t (d_schema w) with
-                       | Some cols => ans_eqb a (ARows cols (rows_of t (d_data w)))
-                       | None => is_error a
-                       end
-           | None => is_error a
-           end
-         | _ => match a with ARows _ _ | AHist _ _ => want_commit r v t a | _ => true end   (* refusing is fine; rows must be the right ones *)
-         end
-(    if revdb_denotes r v then want_commit r v t a
-    else match (norm_base r (fst v), snd v) with
-         | (BBranch b, []) =>                         (* dirty branch: `db/branch` is the branch's working set *)
-           match branch_working r b with
-           | Some w => match assoc t (d_schema w) with
-                       | Some cols => ans_eqb a (ARows cols (rows_of t (d_data w)))
-                       | None => is_error a
-                       end
-           | None => is_error a
-           end
-         | _ => match a with ARows _ _ | AHist _ _ => want_commit r v t a | _ => true end   (* refusing is fine; rows must be the right ones *)
-         end
-r    if revdb_denotes r v then want_commit r v t a
-    else match (norm_base r (fst v), snd v) with
-         | (BBranch b, []) =>                         (* dirty branch: `db/branch` is the branch's working set *)
-           match branch_working r b with
-           | Some w => match assoc t (d_schema w) with
-                       | Some cols => ans_eqb a (ARows cols (rows_of t (d_data w)))
-                       | None => is_error a
-                       end
-           | None => is_error a
-           end
-         | _ => match a with ARows _ _ | AHist _ _ => want_commit r v t a | _ => true end   (* refusing is fine; rows must be the right ones *)
-         end
-     if revdb_denotes r v then want_commit r v t a
-    else match (norm_base r (fst v), snd v) with
-         | (BBranch b, []) =>                         (* dirty branch: `db/branch` is the branch's working set *)
-           match branch_working r b with
-           | Some w => match assoc t (d_schema w) with
-                       | Some cols => ans_eqb a (ARows cols (rows_of t (d_data w)))
-                       | None => is_error a
-                       end
-           | None => is_error a
-           end
-         | _ => match a with ARows _ _ | AHist _ _ => want_commit r v t a | _ => true end   (* refusing is fine; rows must be the right ones *)
-         end
-:    if revdb_denotes r v then want_commit r v t a
-    else match (norm_base r (fst v), snd v) with
-         | (BBranch b, []) =>                         (* dirty branch: `db/branch` is the branch's working set *)
-           match branch_working r b with
-           | Some w => match assoc t (d_schema w) with
-                       | Some cols => ans_eqb a (ARows cols (rows_of t (d_data w)))
-                       | None => is_error a
-                       end
-           | None => is_error a
-           end
-         | _ => match a with ARows _ _ | AHist _ _ => want_commit r v t a | _ => true end   (* refusing is fine; rows must be the right ones *)
-         end
-     if revdb_denotes r v then want_commit r v t a
-    else match (norm_base r (fst v), snd v) with
-         | (BBranch b, []) =>                         (* dirty branch: `db/branch` is the branch's working set *)
-           match branch_working r b with
-           | Some w => match assoc t (d_schema w) with
-                       | Some cols => ans_eqb a (ARows cols (rows_of t (d_data w)))
-                       | None => is_error a
-                       end
-           | None => is_error a
-           end
-         | _ => match a with ARows _ _ | AHist _ _ => want_commit r v t a | _ => true end   (* refusing is fine; rows must be the right ones *)
-         end
-r    if revdb_denotes r v then want_commit r v t a
-    else match (norm_base r (fst v), snd v) with
-         | (BBranch b, []) =>                         (* dirty branch: `db/branch` is the branch's working set *)
-           match branch_working r b with
-           | Some w => match assoc t (d_schema w) with
-                       | Some cols => ans_eqb a (ARows cols (rows_of t (d_data w)))
-                       | None => is_error a
-                       end
-           | None => is_error a
-           end
-         | _ => match a with ARows _ _ | AHist _ _ => want_commit r v t a | _ => true end   (* refusing is fine; rows must be the right ones *)
-         end
-e    if revdb_denotes r v then want_commit r v t a
-    else match (norm_base r (fst v), snd v) with
-         | (BBranch b, []) =>                         (* dirty branch: `db/branch` is the branch's working set *)
-           match branch_working r b with
-           | Some w => match assoc t (d_schema w) with
-                       | Some cols => ans_eqb a (ARows cols (rows_of t (d_data w)))
-                       | None => is_error a
-                       end
-           | None => is_error a
-           end
-         | _ => match a with ARows _ _ | AHist _ _ => want_commit r v t a | _ => true end   (* refusing is fine; rows must be the right ones *)
-         end
-p    if revdb_denotes r v then want_commit r v t a
-    else match (norm_base r (fst v), snd v) with
-         | (BBranch b, []) =>                         (* dirty branch: `db/branch` is the branch's working set *)
-           match branch_working r b with
-           | Some w => match assoc t (d_schema w) with
-                       | Some cols => ans_eqb a (ARows cols (rows_of t (d_data w)))
-                       | None => is_error a
-                       end
-           | None => is_error a
-           end
-         | _ => match a with ARows _ _ | AHist _ _ => want_commit r v t a | _ => true end   (* refusing is fine; rows must be the right ones *)
-         end
-o    if revdb_denotes r v then want_commit r v t a
-    else match (norm_base r (fst v), snd v) with
-         | (BBranch b, []) =>                         (* dirty branch: `db/branch` is the branch's working set *)
-           match branch_working r b with
-           | Some w => match assoc t (d_schema w) with
-                       | Some cols => ans_eqb a (ARows cols (rows_of t (d_data w)))
-                       | None => is_error a
-                       end
-           | None => is_error a
-           end
-         | _ => match a with ARows _ _ | AHist _ _ => want_commit r v t a | _ => true end   (* refusing is fine; rows must be the right ones *)
-         end
-)    if revdb_denotes r v then want_commit r v t a
-    else match (norm_base r (fst v), snd v) with
-         | (BBranch b, []) =>                         (* dirty branch: `db/branch` is the branch's working set *)
-           match branch_working r b with
-           | Some w => match assoc t (d_schema w) with
-                       | Some cols => ans_eqb a (ARows cols (rows_of t (d_data w)))
-                       | None => is_error a
-                       end
-           | None => is_error a
-           end
-         | _ => match a with ARows _ _ | AHist _ _ => want_commit r v t a | _ => true end   (* refusing is fine; rows must be the right ones *)
-         end
-     if revdb_denotes r v then want_commit r v t a
-    else match (norm_base r (fst v), snd v) with
-         | (BBranch b, []) =>                         (* dirty branch: `db/branch` is the branch's working set *)
-           match branch_working r b with
-           | Some w => match assoc t (d_schema w) with
-                       | Some cols => ans_eqb a (ARows cols (rows_of t (d_data w)))
-                       | None => is_error a
-                       end
-           | None => is_error a
-           end
-         | _ => match a with ARows _ _ | AHist _ _ => want_commit r v t a | _ => true end   (* refusing is fine; rows must be the right ones *)
-         end
-(    if revdb_denotes r v then want_commit r v t a
-    else match (norm_base r (fst v), snd v) with
-         | (BBranch b, []) =>                         (* dirty branch: `db/branch` is the branch's working set *)
-           match branch_working r b with
-           | Some w => match assoc t (d_schema w) with
-                       | Some cols => ans_eqb a (ARows cols (rows_of t (d_data w)))
-                       | None => is_error a
-                       end
-           | None => is_error a
-           end
-         | _ => match a with ARows _ _ | AHist _ _ => want_commit r v t a | _ => true end   (* refusing is fine; rows must be the right ones *)
-         end
-v    if revdb_denotes r v then want_commit r v t a
-    else match (norm_base r (fst v), snd v) with
-         | (BBranch b, []) =>                         (* dirty branch: `db/branch` is the branch's working set *)
-           match branch_working r b with
-           | Some w => match assoc t (d_schema w) with
-                       | Some cols => ans_eqb a (ARows cols (rows_of t (d_data w)))
-                       | None => is_error a
-                       end
-           | None => is_error a
-           end
-         | _ => match a with ARows _ _ | AHist _ _ => want_commit r v t a | _ => true end   (* refusing is fine; rows must be the right ones *)
-         end
-     if revdb_denotes r v then want_commit r v t a
-    else match (norm_base r (fst v), snd v) with
-         | (BBranch b, []) =>                         (* dirty branch: `db/branch` is the branch's working set *)
-           match branch_working r b with
-           | Some w => match assoc t (d_schema w) with
-                       | Some cols => ans_eqb a (ARows cols (rows_of t (d_data w)))
-                       | None => is_error a
-                       end
-           | None => is_error a
-           end
-         | _ => match a with ARows _ _ | AHist _ _ => want_commit r v t a | _ => true end   (* refusing is fine; rows must be the right ones *)
-         end
-:    if revdb_denotes r v then want_commit r v t a
-    else match (norm_base r (fst v), snd v) with
-         | (BBranch b, []) =>                         (* dirty branch: `db/branch` is the branch's working set *)
-           match branch_working r b with
-           | Some w => match assoc t (d_schema w) with
-                       | Some cols => ans_eqb a (ARows cols (rows_of t (d_data w)))
-                       | None => is_error a
-                       end
-           | None => is_error a
-           end
-         | _ => match a with ARows _ _ | AHist _ _ => want_commit r v t a | _ => true end   (* refusing is fine; rows must be the right ones *)
-         end
-     if revdb_denotes r v then want_commit r v t a
-    else match (norm_base r (fst v), snd v) with
-         | (BBranch b, []) =>                         (* dirty branch: `db/branch` is the branch's working set *)
-           match branch_working r b with
-           | Some w => match assoc t (d_schema w) with
-                       | Some cols => ans_eqb a (ARows cols (rows_of t (d_data w)))
-                       | None => is_error a
-                       end
-           | None => is_error a
-           end
-         | _ => match a with ARows _ _ | AHist _ _ => want_commit r v t a | _ => true end   (* refusing is fine; rows must be the right ones *)
-         end
-r    if revdb_denotes r v then want_commit r v t a
-    else match (norm_base r (fst v), snd v) with
-         | (BBranch b, []) =>                         (* dirty branch: `db/branch` is the branch's working set *)
-           match branch_working r b with
-           | Some w => match assoc t (d_schema w) with
-                       | Some cols => ans_eqb a (ARows cols (rows_of t (d_data w)))
-                       | None => is_error a
-                       end
-           | None => is_error a
-           end
-         | _ => match a with ARows _ _ | AHist _ _ => want_commit r v t a | _ => true end   (* refusing is fine; rows must be the right ones *)
-         end
-e    if revdb_denotes r v then want_commit r v t a
-    else match (norm_base r (fst v), snd v) with
-         | (BBranch b, []) =>                         (* dirty branch: `db/branch` is the branch's working set *)
-           match branch_working r b with
-           | Some w => match assoc t (d_schema w) with
-                       | Some cols => ans_eqb a (ARows cols (rows_of t (d_data w)))
-                       | None => is_error a
-                       end
-           | None => is_error a
-           end
-         | _ => match a with ARows _ _ | AHist _ _ => want_commit r v t a | _ => true end   (* refusing is fine; rows must be the right ones *)
-         end
-v    if revdb_denotes r v then want_commit r v t a
-    else match (norm_base r (fst v), snd v) with
-         | (BBranch b, []) =>                         (* dirty branch: `db/branch` is the branch's working set *)
-           match branch_working r b with
-           | Some w => match assoc t (d_schema w) with
-                       | Some cols => ans_eqb a (ARows cols (rows_of t (d_data w)))
-                       | None => is_error a
-                       end
-           | None => is_error a
-           end
-         | _ => match a with ARows _ _ | AHist _ _ => want_commit r v t a | _ => true end   (* refusing is fine; rows must be the right ones *)
-         end
-)    if revdb_denotes r v then want_commit r v t a
-    else match (norm_base r (fst v), snd v) with
-         | (BBranch b, []) =>                         (* dirty branch: `db/branch` is the branch's working set *)
-           match branch_working r b with
-           | Some w => match assoc t (d_schema w) with
-                       | Some cols => ans_eqb a (ARows cols (rows_of t (d_data w)))
-                       | None => is_error a
-                       end
-           | None => is_error a
-           end
-         | _ => match a with ARows _ _ | AHist _ _ => want_commit r v t a | _ => true end   (* refusing is fine; rows must be the right ones *)
-         end
-     if revdb_denotes r v then want_commit r v t a
-    else match (norm_base r (fst v), snd v) with
-         | (BBranch b, []) =>                         (* dirty branch: `db/branch` is the branch's working set *)
-           match branch_working r b with
-           | Some w => match assoc t (d_schema w) with
-                       | Some cols => ans_eqb a (ARows cols (rows_of t (d_data w)))
-                       | None => is_error a
-                       end
-           | None => is_error a
-           end
-         | _ => match a with ARows _ _ | AHist _ _ => want_commit r v t a | _ => true end   (* refusing is fine; rows must be the right ones *)
-         end
-(    if revdb_denotes r v then want_commit r v t a
-    else match (norm_base r (fst v), snd v) with
-         | (BBranch b, []) =>                         (* dirty branch: `db/branch` is the branch's working set *)
-           match branch_working r b with
-           | Some w => match assoc t (d_schema w) with
-                       | Some cols => ans_eqb a (ARows cols (rows_of t (d_data w)))
-                       | None => is_error a
-                       end
-           | None => is_error a
-           end
-         | _ => match a with ARows _ _ | AHist _ _ => want_commit r v t a | _ => true end   (* refusing is fine; rows must be the right ones *)
-         end
-t    if revdb_denotes r v then want_commit r v t a
-    else match (norm_base r (fst v), snd v) with
-         | (BBranch b, []) =>                         (* dirty branch: `db/branch` is the branch's working set *)
-           match branch_working r b with
-           | Some w => match assoc t (d_schema w) with
-                       | Some cols => ans_eqb a (ARows cols (rows_of t (d_data w)))
-                       | None => is_error a
-                       end
-           | None => is_error a
-           end
-         | _ => match a with ARows _ _ | AHist _ _ => want_commit r v t a | _ => true end   (* refusing is fine; rows must be the right ones *)
-         end
-     if revdb_denotes r v then want_commit r v t a
-    else match (norm_base r (fst v), snd v) with
-         | (BBranch b, []) =>                         (* dirty branch: `db/branch` is the branch's working set *)
-           match branch_working r b with
-           | Some w => match assoc t (d_schema w) with
-                       | Some cols => ans_eqb a (ARows cols (rows_of t (d_data w)))
-                       | None => is_error a
-                       end
-           | None => is_error a
-           end
-         | _ => match a with ARows _ _ | AHist _ _ => want_commit r v t a | _ => true end   (* refusing is fine; rows must be the right ones *)
-         end
-:    if revdb_denotes r v then want_commit r v t a
-    else match (norm_base r (fst v), snd v) with
-         | (BBranch b, []) =>                         (* dirty branch: `db/branch` is the branch's working set *)
-           match branch_working r b with
-           | Some w => match assoc t (d_schema w) with
-                       | Some cols => ans_eqb a (ARows cols (rows_of t (d_data w)))
-                       | None => is_error a
-                       end
-           | None => is_error a
-           end
-         | _ => match a with ARows _ _ | AHist _ _ => want_commit r v t a | _ => true end   (* refusing is fine; rows must be the right ones *)
-         end
-     if revdb_denotes r v then want_commit r v t a
-    else match (norm_base r (fst v), snd v) with
-         | (BBranch b, []) =>                         (* dirty branch: `db/branch` is the branch's working set *)
-           match branch_working r b with
-           | Some w => match assoc t (d_schema w) with
-                       | Some cols => ans_eqb a (ARows cols (rows_of t (d_data w)))
-                       | None => is_error a
-                       end
-           | None => is_error a
-           end
-         | _ => match a with ARows _ _ | AHist _ _ => want_commit r v t a | _ => true end   (* refusing is fine; rows must be the right ones *)
-         end
-N    if revdb_denotes r v then want_commit r v t a
-    else match (norm_base r (fst v), snd v) with
-         | (BBranch b, []) =>                         (* dirty branch: `db/branch` is the branch's working set *)
-           match branch_working r b with
-           | Some w => match assoc t (d_schema w) with
-                       | Some cols => ans_eqb a (ARows cols (rows_of t (d_data w)))
-                       | None => is_error a
-                       end
-           | None => is_error a
-           end
-         | _ => match a with ARows _ _ | AHist _ _ => want_commit r v t a | _ => true end   (* refusing is fine; rows must be the right ones *)
-         end
-)    if revdb_denotes r v then want_commit r v t a
-    else match (norm_base r (fst v), snd v) with
-         | (BBranch b, []) =>                         (* dirty branch: `db/branch` is the branch's working set *)
-           match branch_working r b with
-           | Some w => match assoc t (d_schema w) with
-                       | Some cols => ans_eqb a (ARows cols (rows_of t (d_data w)))
-                       | None => is_error a
-                       end
-           | None => is_error a
-           end
-         | _ => match a with ARows _ _ | AHist _ _ => want_commit r v t a | _ => true end   (* refusing is fine; rows must be the right ones *)
-         end
-     if revdb_denotes r v then want_commit r v t a
-    else match (norm_base r (fst v), snd v) with
-         | (BBranch b, []) =>                         (* dirty branch: `db/branch` is the branch's working set *)
-           match branch_working r b with
-           | Some w => match assoc t (d_schema w) with
-                       | Some cols => ans_eqb a (ARows cols (rows_of t (d_data w)))
-                       | None => is_error a
-                       end
-           | None => is_error a
-           end
-         | _ => match a with ARows _ _ | AHist _ _ => want_commit r v t a | _ => true end   (* refusing is fine; rows must be the right ones *)
-         end
-(    if revdb_denotes r v then want_commit r v t a
-    else match (norm_base r (fst v), snd v) with
-         | (BBranch b, []) =>                         (* dirty branch: `db/branch` is the branch's working set *)
-           match branch_working r b with
-           | Some w => match assoc t (d_schema w) with
-                       | Some cols => ans_eqb a (ARows cols (rows_of t (d_data w)))
-                       | None => is_error a
-                       end
-           | None => is_error a
-           end
-         | _ => match a with ARows _ _ | AHist _ _ => want_commit r v t a | _ => true end   (* refusing is fine; rows must be the right ones *)
-         end
-a    if revdb_denotes r v then want_commit r v t a
-    else match (norm_base r (fst v), snd v) with
-         | (BBranch b, []) =>                         (* dirty branch: `db/branch` is the branch's working set *)
-           match branch_working r b with
-           | Some w => match assoc t (d_schema w) with
-                       | Some cols => ans_eqb a (ARows cols (rows_of t (d_data w)))
-                       | None => is_error a
-                       end
-           | None => is_error a
-           end
-         | _ => match a with ARows _ _ | AHist _ _ => want_commit r v t a | _ => true end   (* refusing is fine; rows must be the right ones *)
-         end
-     if revdb_denotes r v then want_commit r v t a
-    else match (norm_base r (fst v), snd v) with
-         | (BBranch b, []) =>                         (* dirty branch: `db/branch` is the branch's working set *)
-           match branch_working r b with
-           | Some w => match assoc t (d_schema w) with
-                       | Some cols => ans_eqb a (ARows cols (rows_of t (d_data w)))
-                       | None => is_error a
-                       end
-           | None => is_error a
-           end
-         | _ => match a with ARows _ _ | AHist _ _ => want_commit r v t a | _ => true end   (* refusing is fine; rows must be the right ones *)
-         end
-:    if revdb_denotes r v then want_commit r v t a
-    else match (norm_base r (fst v), snd v) with
-         | (BBranch b, []) =>                         (* dirty branch: `db/branch` is the branch's working set *)
-           match branch_working r b with
-           | Some w => match assoc t (d_schema w) with
-                       | Some cols => ans_eqb a (ARows cols (rows_of t (d_data w)))
-                       | None => is_error a
-                       end
-           | None => is_error a
-           end
-         | _ => match a with ARows _ _ | AHist _ _ => want_commit r v t a | _ => true end   (* refusing is fine; rows must be the right ones *)
-         end
-     if revdb_denotes r v then want_commit r v t a
-    else match (norm_base r (fst v), snd v) with
-         | (BBranch b, []) =>                         (* dirty branch: `db/branch` is the branch's working set *)
-           match branch_working r b with
-           | Some w => match assoc t (d_schema w) with
-                       | Some cols => ans_eqb a (ARows cols (rows_of t (d_data w)))
-                       | None => is_error a
-                       end
-           | None => is_error a
-           end
-         | _ => match a with ARows _ _ | AHist _ _ => want_commit r v t a | _ => true end   (* refusing is fine; rows must be the right ones *)
-         end
-a    if revdb_denotes r v then want_commit r v t a
-    else match (norm_base r (fst v), snd v) with
-         | (BBranch b, []) =>                         (* dirty branch: `db/branch` is the branch's working set *)
-           match branch_working r b with
-           | Some w => match assoc t (d_schema w) with
-                       | Some cols => ans_eqb a (ARows cols (rows_of t (d_data w)))
-                       | None => is_error a
-                       end
-           | None => is_error a
-           end
-         | _ => match a with ARows _ _ | AHist _ _ => want_commit r v t a | _ => true end   (* refusing is fine; rows must be the right ones *)
-         end
-n    if revdb_denotes r v then want_commit r v t a
-    else match (norm_base r (fst v), snd v) with
-         | (BBranch b, []) =>                         (* dirty branch: `db/branch` is the branch's working set *)
-           match branch_working r b with
-           | Some w => match assoc t (d_schema w) with
-                       | Some cols => ans_eqb a (ARows cols (rows_of t (d_data w)))
-                       | None => is_error a
-                       end
-           | None => is_error a
-           end
-         | _ => match a with ARows _ _ | AHist _ _ => want_commit r v t a | _ => true end   (* refusing is fine; rows must be the right ones *)
-         end
-s    if revdb_denotes r v then want_commit r v t a
-    else match (norm_base r (fst v), snd v) with
-         | (BBranch b, []) =>                         (* dirty branch: `db/branch` is the branch's working set *)
-           match branch_working r b with
-           | Some w => match assoc t (d_schema w) with
-                       | Some cols => ans_eqb a (ARows cols (rows_of t (d_data w)))
-                       | None => is_error a
-                       end
-           | None => is_error a
-           end
-         | _ => match a with ARows _ _ | AHist _ _ => want_commit r v t a | _ => true end   (* refusing is fine; rows must be the right ones *)
-         end
-)    if revdb_denotes r v then want_commit r v t a
-    else match (norm_base r (fst v), snd v) with
-         | (BBranch b, []) =>                         (* dirty branch: `db/branch` is the branch's working set *)
-           match branch_working r b with
-           | Some w => match assoc t (d_schema w) with
-                       | Some cols => ans_eqb a (ARows cols (rows_of t (d_data w)))
-                       | None => is_error a
-                       end
-           | None => is_error a
-           end
-         | _ => match a with ARows _ _ | AHist _ _ => want_commit r v t a | _ => true end   (* refusing is fine; rows must be the right ones *)
-         end
-     if revdb_denotes r v then want_commit r v t a
-    else match (norm_base r (fst v), snd v) with
-         | (BBranch b, []) =>                         (* dirty branch: `db/branch` is the branch's working set *)
-           match branch_working r b with
-           | Some w => match assoc t (d_schema w) with
-                       | Some cols => ans_eqb a (ARows cols (rows_of t (d_data w)))
-                       | None => is_error a
-                       end
-           | None => is_error a
-           end
-         | _ => match a with ARows _ _ | AHist _ _ => want_commit r v t a | _ => true end   (* refusing is fine; rows must be the right ones *)
-         end
-:    if revdb_denotes r v then want_commit r v t a
-    else match (norm_base r (fst v), snd v) with
-         | (BBranch b, []) =>                         (* dirty branch: `db/branch` is the branch's working set *)
-           match branch_working r b with
-           | Some w => match assoc t (d_schema w) with
-                       | Some cols => ans_eqb a (ARows cols (rows_of t (d_data w)))
-                       | None => is_error a
-                       end
-           | None => is_error a
-           end
-         | _ => match a with ARows _ _ | AHist _ _ => want_commit r v t a | _ => true end   (* refusing is fine; rows must be the right ones *)
-         end
-     if revdb_denotes r v then want_commit r v t a
-    else match (norm_base r (fst v), snd v) with
-         | (BBranch b, []) =>                         (* dirty branch: `db/branch` is the branch's working set *)
-           match branch_working r b with
-           | Some w => match assoc t (d_schema w) with
-                       | Some cols => ans_eqb a (ARows cols (rows_of t (d_data w)))
-                       | None => is_error a
-                       end
-           | None => is_error a
-           end
-         | _ => match a with ARows _ _ | AHist _ _ => want_commit r v t a | _ => true end   (* refusing is fine; rows must be the right ones *)
-         end
-b    if revdb_denotes r v then want_commit r v t a
-    else match (norm_base r (fst v), snd v) with
-         | (BBranch b, []) =>                         (* dirty branch: `db/branch` is the branch's working set *)
-           match branch_working r b with
-           | Some w => match assoc t (d_schema w) with
-                       | Some cols => ans_eqb a (ARows cols (rows_of t (d_data w)))
-                       | None => is_error a
-                       end
-           | None => is_error a
-           end
-         | _ => match a with ARows _ _ | AHist _ _ => want_commit r v t a | _ => true end   (* refusing is fine; rows must be the right ones *)
-         end
-o    if revdb_denotes r v then want_commit r v t a
-    else match (norm_base r (fst v), snd v) with
-         | (BBranch b, []) =>                         (* dirty branch: `db/branch` is the branch's working set *)
-           match branch_working r b with
-           | Some w => match assoc t (d_schema w) with
-                       | Some cols => ans_eqb a (ARows cols (rows_of t (d_data w)))
-                       | None => is_error a
-                       end
-           | None => is_error a
-           end
-         | _ => match a with ARows _ _ | AHist _ _ => want_commit r v t a | _ => true end   (* refusing is fine; rows must be the right ones *)
-         end
-o    if revdb_denotes r v then want_commit r v t a
-    else match (norm_base r (fst v), snd v) with
-         | (BBranch b, []) =>                         (* dirty branch: `db/branch` is the branch's working set *)
-           match branch_working r b with
-           | Some w => match assoc t (d_schema w) with
-                       | Some cols => ans_eqb a (ARows cols (rows_of t (d_data w)))
-                       | None => is_error a
-                       end
-           | None => is_error a
-           end
-         | _ => match a with ARows _ _ | AHist _ _ => want_commit r v t a | _ => true end   (* refusing is fine; rows must be the right ones *)
-         end
-l    if revdb_denotes r v then want_commit r v t a
-    else match (norm_base r (fst v), snd v) with
-         | (BBranch b, []) =>                         (* dirty branch: `db/branch` is the branch's working set *)
-           match branch_working r b with
-           | Some w => match assoc t (d_schema w) with
-                       | Some cols => ans_eqb a (ARows cols (rows_of t (d_data w)))
-                       | None => is_error a
-                       end
-           | None => is_error a
-           end
-         | _ => match a with ARows _ _ | AHist _ _ => want_commit r v t a | _ => true end   (* refusing is fine; rows must be the right ones *)
-         end
-     if revdb_denotes r v then want_commit r v t a
-    else match (norm_base r (fst v), snd v) with
-         | (BBranch b, []) =>                         (* dirty branch: `db/branch` is the branch's working set *)
-           match branch_working r b with
-           | Some w => match assoc t (d_schema w) with
-                       | Some cols => ans_eqb a (ARows cols (rows_of t (d_data w)))
-                       | None => is_error a
-                       end
-           | None => is_error a
-           end
-         | _ => match a with ARows _ _ | AHist _ _ => want_commit r v t a | _ => true end   (* refusing is fine; rows must be the right ones *)
-         end
-:    if revdb_denotes r v then want_commit r v t a
-    else match (norm_base r (fst v), snd v) with
-         | (BBranch b, []) =>                         (* dirty branch: `db/branch` is the branch's working set *)
-           match branch_working r b with
-           | Some w => match assoc t (d_schema w) with
-                       | Some cols => ans_eqb a (ARows cols (rows_of t (d_data w)))
-                       | None => is_error a
-                       end
-           | None => is_error a
-           end
-         | _ => match a with ARows _ _ | AHist _ _ => want_commit r v t a | _ => true end   (* refusing is fine; rows must be the right ones *)
-         end
-=    if revdb_denotes r v then want_commit r v t a
-    else match (norm_base r (fst v), snd v) with
-         | (BBranch b, []) =>                         (* dirty branch: `db/branch` is the branch's working set *)
-           match branch_working r b with
-           | Some w => match assoc t (d_schema w) with
-                       | Some cols => ans_eqb a (ARows cols (rows_of t (d_data w)))
-                       | None => is_error a
-                       end
-           | None => is_error a
-           end
-         | _ => match a with ARows _ _ | AHist _ _ => want_commit r v t a | _ => true end   (* refusing is fine; rows must be the right ones *)
-         end
-
-    if revdb_denotes r v then want_commit r v t a
-    else match (norm_base r (fst v), snd v) with
-         | (BBranch b, []) =>                         (* dirty branch: `db/branch` is the branch's working set *)
-           match branch_working r b with
-           | Some w => match assoc t (d_schema w) with
-                       | Some cols => ans_eqb a (ARows cols (rows_of t (d_data w)))
-                       | None => is_error a
-                       end
-           | None => is_error a
-           end
-         | _ => match a with ARows _ _ | AHist _ _ => want_commit r v t a | _ => true end   (* refusing is fine; rows must be the right ones *)
-         end
-     if revdb_denotes r v then want_commit r v t a
-    else match (norm_base r (fst v), snd v) with
-         | (BBranch b, []) =>                         (* dirty branch: `db/branch` is the branch's working set *)
-           match branch_working r b with
-           | Some w => match assoc t (d_schema w) with
-                       | Some cols => ans_eqb a (ARows cols (rows_of t (d_data w)))
-                       | None => is_error a
-                       end
-           | None => is_error a
-           end
-         | _ => match a with ARows _ _ | AHist _ _ => want_commit r v t a | _ => true end   (* refusing is fine; rows must be the right ones *)
-         end
-     if revdb_denotes r v then want_commit r v t a
-    else match (norm_base r (fst v), snd v) with
-         | (BBranch b, []) =>                         (* dirty branch: `db/branch` is the branch's working set *)
-           match branch_working r b with
-           | Some w => match assoc t (d_schema w) with
-                       | Some cols => ans_eqb a (ARows cols (rows_of t (d_data w)))
-                       | None => is_error a
-                       end
-           | None => is_error a
-           end
-         | _ => match a with ARows _ _ | AHist _ _ => want_commit r v t a | _ => true end   (* refusing is fine; rows must be the right ones *)
-         end
-m    if revdb_denotes r v then want_commit r v t a
-    else match (norm_base r (fst v), snd v) with
-         | (BBranch b, []) =>                         (* dirty branch: `db/branch` is the branch's working set *)
-           match branch_working r b with
-           | Some w => match assoc t (d_schema w) with
-                       | Some cols => ans_eqb a (ARows cols (rows_of t (d_data w)))
-                       | None => is_error a
-                       end
-           | None => is_error a
-           end
-         | _ => match a with ARows _ _ | AHist _ _ => want_commit r v t a | _ => true end   (* refusing is fine; rows must be the right ones *)
-         end
-a    if revdb_denotes r v then want_commit r v t a
-    else match (norm_base r (fst v), snd v) with
-         | (BBranch b, []) =>                         (* dirty branch: `db/branch` is the branch's working set *)
-           match branch_working r b with
-           | Some w => match assoc t (d_schema w) with
-                       | Some cols => ans_eqb a (ARows cols (rows_of t (d_data w)))
-                       | None => is_error a
-                       end
-           | None => is_error a
-           end
-         | _ => match a with ARows _ _ | AHist _ _ => want_commit r v t a | _ => true end   (* refusing is fine; rows must be the right ones *)
-         end
-t    if revdb_denotes r v then want_commit r v t a
-    else match (norm_base r (fst v), snd v) with
-         | (BBranch b, []) =>                         (* dirty branch: `db/branch` is the branch's working set *)
-           match branch_working r b with
-           | Some w => match assoc t (d_schema w) with
-                       | Some cols => ans_eqb a (ARows cols (rows_of t (d_data w)))
-                       | None => is_error a
-                       end
-           | None => is_error a
-           end
-         | _ => match a with ARows _ _ | AHist _ _ => want_commit r v t a | _ => true end   (* refusing is fine; rows must be the right ones *)
-         end
-c    if revdb_denotes r v then want_commit r v t a
-    else match (norm_base r (fst v), snd v) with
-         | (BBranch b, []) =>                         (* dirty branch: `db/branch` is the branch's working set *)
-           match branch_working r b with
-           | Some w => match assoc t (d_schema w) with
-                       | Some cols => ans_eqb a (ARows cols (rows_of t (d_data w)))
-                       | None => is_error a
-                       end
-           | None => is_error a
-           end
-         | _ => match a with ARows _ _ | AHist _ _ => want_commit r v t a | _ => true end   (* refusing is fine; rows must be the right ones *)
-         end
-h    if revdb_denotes r v then want_commit r v t a
-    else match (norm_base r (fst v), snd v) with
-         | (BBranch b, []) =>                         (* dirty branch: `db/branch` is the branch's working set *)
-           match branch_working r b with
-           | Some w => match assoc t (d_schema w) with
-                       | Some cols => ans_eqb a (ARows cols (rows_of t (d_data w)))
-                       | None => is_error a
-                       end
-           | None => is_error a
-           end
-         | _ => match a with ARows _ _ | AHist _ _ => want_commit r v t a | _ => true end   (* refusing is fine; rows must be the right ones *)
-         end
-     if revdb_denotes r v then want_commit r v t a
-    else match (norm_base r (fst v), snd v) with
-         | (BBranch b, []) =>                         (* dirty branch: `db/branch` is the branch's working set *)
-           match branch_working r b with
-           | Some w => match assoc t (d_schema w) with
-                       | Some cols => ans_eqb a (ARows cols (rows_of t (d_data w)))
-                       | None => is_error a
-                       end
-           | None => is_error a
-           end
-         | _ => match a with ARows _ _ | AHist _ _ => want_commit r v t a | _ => true end   (* refusing is fine; rows must be the right ones *)
-         end
-r    if revdb_denotes r v then want_commit r v t a
-    else match (norm_base r (fst v), snd v) with
-         | (BBranch b, []) =>                         (* dirty branch: `db/branch` is the branch's working set *)
-           match branch_working r b with
-           | Some w => match assoc t (d_schema w) with
-                       | Some cols => ans_eqb a (ARows cols (rows_of t (d_data w)))
-                       | None => is_error a
-                       end
-           | None => is_error a
-           end
-         | _ => match a with ARows _ _ | AHist _ _ => want_commit r v t a | _ => true end   (* refusing is fine; rows must be the right ones *)
-         end
-e    if revdb_denotes r v then want_commit r v t a
-    else match (norm_base r (fst v), snd v) with
-         | (BBranch b, []) =>                         (* dirty branch: `db/branch` is the branch's working set *)
-           match branch_working r b with
-           | Some w => match assoc t (d_schema w) with
-                       | Some cols => ans_eqb a (ARows cols (rows_of t (d_data w)))
-                       | None => is_error a
-                       end
-           | None => is_error a
-           end
-         | _ => match a with ARows _ _ | AHist _ _ => want_commit r v t a | _ => true end   (* refusing is fine; rows must be the right ones *)
-         end
-s    if revdb_denotes r v then want_commit r v t a
-    else match (norm_base r (fst v), snd v) with
-         | (BBranch b, []) =>                         (* dirty branch: `db/branch` is the branch's working set *)
-           match branch_working r b with
-           | Some w => match assoc t (d_schema w) with
-                       | Some cols => ans_eqb a (ARows cols (rows_of t (d_data w)))
-                       | None => is_error a
-                       end
-           | None => is_error a
-           end
-         | _ => match a with ARows _ _ | AHist _ _ => want_commit r v t a | _ => true end   (* refusing is fine; rows must be the right ones *)
-         end
-o    if revdb_denotes r v then want_commit r v t a
-    else match (norm_base r (fst v), snd v) with
-         | (BBranch b, []) =>                         (* dirty branch: `db/branch` is the branch's working set *)
-           match branch_working r b with
-           | Some w => match assoc t (d_schema w) with
-                       | Some cols => ans_eqb a (ARows cols (rows_of t (d_data w)))
-                       | None => is_error a
-                       end
-           | None => is_error a
-           end
-         | _ => match a with ARows _ _ | AHist _ _ => want_commit r v t a | _ => true end   (* refusing is fine; rows must be the right ones *)
-         end
-l    if revdb_denotes r v then want_commit r v t a
-    else match (norm_base r (fst v), snd v) with
-         | (BBranch b, []) =>                         (* dirty branch: `db/branch` is the branch's working set *)
-           match branch_working r b with
-           | Some w => match assoc t (d_schema w) with
-                       | Some cols => ans_eqb a (ARows cols (rows_of t (d_data w)))
-                       | None => is_error a
-                       end
-           | None => is_error a
-           end
-         | _ => match a with ARows _ _ | AHist _ _ => want_commit r v t a | _ => true end   (* refusing is fine; rows must be the right ones *)
-         end
-v    if revdb_denotes r v then want_commit r v t a
-    else match (norm_base r (fst v), snd v) with
-         | (BBranch b, []) =>                         (* dirty branch: `db/branch` is the branch's working set *)
-           match branch_working r b with
-           | Some w => match assoc t (d_schema w) with
-                       | Some cols => ans_eqb a (ARows cols (rows_of t (d_data w)))
-                       | None => is_error a
-                       end
-           | None => is_error a
-           end
-         | _ => match a with ARows _ _ | AHist _ _ => want_commit r v t a | _ => true end   (* refusing is fine; rows must be the right ones *)
-         end
-e    if revdb_denotes r v then want_commit r v t a
-    else match (norm_base r (fst v), snd v) with
-         | (BBranch b, []) =>                         (* dirty branch: `db/branch` is the branch's working set *)
-           match branch_working r b with
-           | Some w => match assoc t (d_schema w) with
-                       | Some cols => ans_eqb a (ARows cols (rows_of t (d_data w)))
-                       | None => is_error a
-                       end
-           | None => is_error a
-           end
-         | _ => match a with ARows _ _ | AHist _ _ => want_commit r v t a | _ => true end   (* refusing is fine; rows must be the right ones *)
-         end
-_    if revdb_denotes r v then want_commit r v t a
-    else match (norm_base r (fst v), snd v) with
-         | (BBranch b, []) =>                         (* dirty branch: `db/branch` is the branch's working set *)
-           match branch_working r b with
-           | Some w => match assoc t (d_schema w) with
-                       | Some cols => ans_eqb a (ARows cols (rows_of t (d_data w)))
-                       | None => is_error a
-                       end
-           | None => is_error a
-           end
-         | _ => match a with ARows _ _ | AHist _ _ => want_commit r v t a | _ => true end   (* refusing is fine; rows must be the right ones *)
-         end
-r    if revdb_denotes r v then want_commit r v t a
-    else match (norm_base r (fst v), snd v) with
-         | (BBranch b, []) =>                         (* dirty branch: `db/branch` is the branch's working set *)
-           match branch_working r b with
-           | Some w => match assoc t (d_schema w) with
-                       | Some cols => ans_eqb a (ARows cols (rows_of t (d_data w)))
-                       | None => is_error a
-                       end
-           | None => is_error a
-           end
-         | _ => match a with ARows _ _ | AHist _ _ => want_commit r v t a | _ => true end   (* refusing is fine; rows must be the right ones *)
-         end
-e    if revdb_denotes r v then want_commit r v t a
-    else match (norm_base r (fst v), snd v) with
-         | (BBranch b, []) =>                         (* dirty branch: `db/branch` is the branch's working set *)
-           match branch_working r b with
-           | Some w => match assoc t (d_schema w) with
-                       | Some cols => ans_eqb a (ARows cols (rows_of t (d_data w)))
-                       | None => is_error a
-                       end
-           | None => is_error a
-           end
-         | _ => match a with ARows _ _ | AHist _ _ => want_commit r v t a | _ => true end   (* refusing is fine; rows must be the right ones *)
-         end
-v    if revdb_denotes r v then want_commit r v t a
-    else match (norm_base r (fst v), snd v) with
-         | (BBranch b, []) =>                         (* dirty branch: `db/branch` is the branch's working set *)
-           match branch_working r b with
-           | Some w => match assoc t (d_schema w) with
-                       | Some cols => ans_eqb a (ARows cols (rows_of t (d_data w)))
-                       | None => is_error a
-                       end
-           | None => is_error a
-           end
-         | _ => match a with ARows _ _ | AHist _ _ => want_commit r v t a | _ => true end   (* refusing is fine; rows must be the right ones *)
-         end
-     if revdb_denotes r v then want_commit r v t a
-    else match (norm_base r (fst v), snd v) with
-         | (BBranch b, []) =>                         (* dirty branch: `db/branch` is the branch's working set *)
-           match branch_working r b with
-           | Some w => match assoc t (d_schema w) with
-                       | Some cols => ans_eqb a (ARows cols (rows_of t (d_data w)))
-                       | None => is_error a
-                       end
-           | None => is_error a
-           end
-         | _ => match a with ARows _ _ | AHist _ _ => want_commit r v t a | _ => true end   (* refusing is fine; rows must be the right ones *)
-         end
-r    if revdb_denotes r v then want_commit r v t a
-    else match (norm_base r (fst v), snd v) with
-         | (BBranch b, []) =>                         (* dirty branch: `db/branch` is the branch's working set *)
-           match branch_working r b with
-           | Some w => match assoc t (d_schema w) with
-                       | Some cols => ans_eqb a (ARows cols (rows_of t (d_data w)))
-                       | None => is_error a
-                       end
-           | None => is_error a
-           end
-         | _ => match a with ARows _ _ | AHist _ _ => want_commit r v t a | _ => true end   (* refusing is fine; rows must be the right ones *)
-         end
-     if revdb_denotes r v then want_commit r v t a
-    else match (norm_base r (fst v), snd v) with
-         | (BBranch b, []) =>                         (* dirty branch: `db/branch` is the branch's working set *)
-           match branch_working r b with
-           | Some w => match assoc t (d_schema w) with
-                       | Some cols => ans_eqb a (ARows cols (rows_of t (d_data w)))
-                       | None => is_error a
-                       end
-           | None => is_error a
-           end
-         | _ => match a with ARows _ _ | AHist _ _ => want_commit r v t a | _ => true end   (* refusing is fine; rows must be the right ones *)
-         end
-v    if revdb_denotes r v then want_commit r v t a
-    else match (norm_base r (fst v), snd v) with
-         | (BBranch b, []) =>                         (* dirty branch: `db/branch` is the branch's working set *)
-           match branch_working r b with
-           | Some w => match assoc t (d_schema w) with
-                       | Some cols => ans_eqb a (ARows cols (rows_of t (d_data w)))
-                       | None => is_error a
-                       end
-           | None => is_error a
-           end
-         | _ => match a with ARows _ _ | AHist _ _ => want_commit r v t a | _ => true end   (* refusing is fine; rows must be the right ones *)
-         end
-     if revdb_denotes r v then want_commit r v t a
-    else match (norm_base r (fst v), snd v) with
-         | (BBranch b, []) =>                         (* dirty branch: `db/branch` is the branch's working set *)
-           match branch_working r b with
-           | Some w => match assoc t (d_schema w) with
-                       | Some cols => ans_eqb a (ARows cols (rows_of t (d_data w)))
-                       | None => is_error a
-                       end
-           | None => is_error a
-           end
-         | _ => match a with ARows _ _ | AHist _ _ => want_commit r v t a | _ => true end   (* refusing is fine; rows must be the right ones *)
-         end
-w    if revdb_denotes r v then want_commit r v t a
-    else match (norm_base r (fst v), snd v) with
-         | (BBranch b, []) =>                         (* dirty branch: `db/branch` is the branch's working set *)
-           match branch_working r b with
-           | Some w => match assoc t (d_schema w) with
-                       | Some cols => ans_eqb a (ARows cols (rows_of t (d_data w)))
-                       | None => is_error a
-                       end
-           | None => is_error a
-           end
-         | _ => match a with ARows _ _ | AHist _ _ => want_commit r v t a | _ => true end   (* refusing is fine; rows must be the right ones *)
-         end
-i    if revdb_denotes r v then want_commit r v t a
-    else match (norm_base r (fst v), snd v) with
-         | (BBranch b, []) =>                         (* dirty branch: `db/branch` is the branch's working set *)
-           match branch_working r b with
-           | Some w => match assoc t (d_schema w) with
-                       | Some cols => ans_eqb a (ARows cols (rows_of t (d_data w)))
-                       | None => is_error a
-                       end
-           | None => is_error a
-           end
-         | _ => match a with ARows _ _ | AHist _ _ => want_commit r v t a | _ => true end   (* refusing is fine; rows must be the right ones *)
-         end
-t    if revdb_denotes r v then want_commit r v t a
-    else match (norm_base r (fst v), snd v) with
-         | (BBranch b, []) =>                         (* dirty branch: `db/branch` is the branch's working set *)
-           match branch_working r b with
-           | Some w => match assoc t (d_schema w) with
-                       | Some cols => ans_eqb a (ARows cols (rows_of t (d_data w)))
-                       | None => is_error a
-                       end
-           | None => is_error a
-           end
-         | _ => match a with ARows _ _ | AHist _ _ => want_commit r v t a | _ => true end   (* refusing is fine; rows must be the right ones *)
-         end
-h    if revdb_denotes r v then want_commit r v t a
-    else match (norm_base r (fst v), snd v) with
-         | (BBranch b, []) =>                         (* dirty branch: `db/branch` is the branch's working set *)
-           match branch_working r b with
-           | Some w => match assoc t (d_schema w) with
-                       | Some cols => ans_eqb a (ARows cols (rows_of t (d_data w)))
-                       | None => is_error a
-                       end
-           | None => is_error a
-           end
-         | _ => match a with ARows _ _ | AHist _ _ => want_commit r v t a | _ => true end   (* refusing is fine; rows must be the right ones *)
-         end
-
-    if revdb_denotes r v then want_commit r v t a
-    else match (norm_base r (fst v), snd v) with
-         | (BBranch b, []) =>                         (* dirty branch: `db/branch` is the branch's working set *)
-           match branch_working r b with
-           | Some w => match assoc t (d_schema w) with
-                       | Some cols => ans_eqb a (ARows cols (rows_of t (d_data w)))
-                       | None => is_error a
-                       end
-           | None => is_error a
-           end
-         | _ => match a with ARows _ _ | AHist _ _ => want_commit r v t a | _ => true end   (* refusing is fine; rows must be the right ones *)
-         end
-     if revdb_denotes r v then want_commit r v t a
-    else match (norm_base r (fst v), snd v) with
-         | (BBranch b, []) =>                         (* dirty branch: `db/branch` is the branch's working set *)
-           match branch_working r b with
-           | Some w => match assoc t (d_schema w) with
-                       | Some cols => ans_eqb a (ARows cols (rows_of t (d_data w)))
-                       | None => is_error a
-                       end
-           | None => is_error a
-           end
-         | _ => match a with ARows _ _ | AHist _ _ => want_commit r v t a | _ => true end   (* refusing is fine; rows must be the right ones *)
-         end
-     if revdb_denotes r v then want_commit r v t a
-    else match (norm_base r (fst v), snd v) with
-         | (BBranch b, []) =>                         (* dirty branch: `db/branch` is the branch's working set *)
-           match branch_working r b with
-           | Some w => match assoc t (d_schema w) with
-                       | Some cols => ans_eqb a (ARows cols (rows_of t (d_data w)))
-                       | None => is_error a
-                       end
-           | None => is_error a
-           end
-         | _ => match a with ARows _ _ | AHist _ _ => want_commit r v t a | _ => true end   (* refusing is fine; rows must be the right ones *)
-         end
-|    if revdb_denotes r v then want_commit r v t a
-    else match (norm_base r (fst v), snd v) with
-         | (BBranch b, []) =>                         (* dirty branch: `db/branch` is the branch's working set *)
-           match branch_working r b with
-           | Some w => match assoc t (d_schema w) with
-                       | Some cols => ans_eqb a (ARows cols (rows_of t (d_data w)))
-                       | None => is_error a
-                       end
-           | None => is_error a
-           end
-         | _ => match a with ARows _ _ | AHist _ _ => want_commit r v t a | _ => true end   (* refusing is fine; rows must be the right ones *)
-         end
-     if revdb_denotes r v then want_commit r v t a
-    else match (norm_base r (fst v), snd v) with
-         | (BBranch b, []) =>                         (* dirty branch: `db/branch` is the branch's working set *)
-           match branch_working r b with
-           | Some w => match assoc t (d_schema w) with
-                       | Some cols => ans_eqb a (ARows cols (rows_of t (d_data w)))
-                       | None => is_error a
-                       end
-           | None => is_error a
-           end
-         | _ => match a with ARows _ _ | AHist _ _ => want_commit r v t a | _ => true end   (* refusing is fine; rows must be the right ones *)
-         end
-S    if revdb_denotes r v then want_commit r v t a
-    else match (norm_base r (fst v), snd v) with
-         | (BBranch b, []) =>                         (* dirty branch: `db/branch` is the branch's working set *)
-           match branch_working r b with
-           | Some w => match assoc t (d_schema w) with
-                       | Some cols => ans_eqb a (ARows cols (rows_of t (d_data w)))
-                       | None => is_error a
-                       end
-           | None => is_error a
-           end
-         | _ => match a with ARows _ _ | AHist _ _ => want_commit r v t a | _ => true end   (* refusing is fine; rows must be the right ones *)
-         end
-o    if revdb_denotes r v then want_commit r v t a
-    else match (norm_base r (fst v), snd v) with
-         | (BBranch b, []) =>                         (* dirty branch: `db/branch` is the branch's working set *)
-           match branch_working r b with
-           | Some w => match assoc t (d_schema w) with
-                       | Some cols => ans_eqb a (ARows cols (rows_of t (d_data w)))
-                       | None => is_error a
-                       end
-           | None => is_error a
-           end
-         | _ => match a with ARows _ _ | AHist _ _ => want_commit r v t a | _ => true end   (* refusing is fine; rows must be the right ones *)
-         end
-m    if revdb_denotes r v then want_commit r v t a
-    else match (norm_base r (fst v), snd v) with
-         | (BBranch b, []) =>                         (* dirty branch: `db/branch` is the branch's working set *)
-           match branch_working r b with
-           | Some w => match assoc t (d_schema w) with
-                       | Some cols => ans_eqb a (ARows cols (rows_of t (d_data w)))
-                       | None => is_error a
-                       end
-           | None => is_error a
-           end
-         | _ => match a with ARows _ _ | AHist _ _ => want_commit r v t a | _ => true end   (* refusing is fine; rows must be the right ones *)
-         end
-e    if revdb_denotes r v then want_commit r v t a
-    else match (norm_base r (fst v), snd v) with
-         | (BBranch b, []) =>                         (* dirty branch: `db/branch` is the branch's working set *)
-           match branch_working r b with
-           | Some w => match assoc t (d_schema w) with
-                       | Some cols => ans_eqb a (ARows cols (rows_of t (d_data w)))
-                       | None => is_error a
-                       end
-           | None => is_error a
-           end
-         | _ => match a with ARows _ _ | AHist _ _ => want_commit r v t a | _ => true end   (* refusing is fine; rows must be the right ones *)
-         end
-     if revdb_denotes r v then want_commit r v t a
-    else match (norm_base r (fst v), snd v) with
-         | (BBranch b, []) =>                         (* dirty branch: `db/branch` is the branch's working set *)
-           match branch_working r b with
-           | Some w => match assoc t (d_schema w) with
-                       | Some cols => ans_eqb a (ARows cols (rows_of t (d_data w)))
-                       | None => is_error a
-                       end
-           | None => is_error a
-           end
-         | _ => match a with ARows _ _ | AHist _ _ => want_commit r v t a | _ => true end   (* refusing is fine; rows must be the right ones *)
-         end
-i    if revdb_denotes r v then want_commit r v t a
-    else match (norm_base r (fst v), snd v) with
-         | (BBranch b, []) =>                         (* dirty branch: `db/branch` is the branch's working set *)
-           match branch_working r b with
-           | Some w => match assoc t (d_schema w) with
-                       | Some cols => ans_eqb a (ARows cols (rows_of t (d_data w)))
-                       | None => is_error a
-                       end
-           | None => is_error a
-           end
-         | _ => match a with ARows _ _ | AHist _ _ => want_commit r v t a | _ => true end   (* refusing is fine; rows must be the right ones *)
-         end
-     if revdb_denotes r v then want_commit r v t a
-    else match (norm_base r (fst v), snd v) with
-         | (BBranch b, []) =>                         (* dirty branch: `db/branch` is the branch's working set *)
-           match branch_working r b with
-           | Some w => match assoc t (d_schema w) with
-                       | Some cols => ans_eqb a (ARows cols (rows_of t (d_data w)))
-                       | None => is_error a
-                       end
-           | None => is_error a
-           end
-         | _ => match a with ARows _ _ | AHist _ _ => want_commit r v t a | _ => true end   (* refusing is fine; rows must be the right ones *)
-         end
-=    if revdb_denotes r v then want_commit r v t a
-    else match (norm_base r (fst v), snd v) with
-         | (BBranch b, []) =>                         (* dirty branch: `db/branch` is the branch's working set *)
-           match branch_working r b with
-           | Some w => match assoc t (d_schema w) with
-                       | Some cols => ans_eqb a (ARows cols (rows_of t (d_data w)))
-                       | None => is_error a
-                       end
-           | None => is_error a
-           end
-         | _ => match a with ARows _ _ | AHist _ _ => want_commit r v t a | _ => true end   (* refusing is fine; rows must be the right ones *)
-         end
->    if revdb_denotes r v then want_commit r v t a
-    else match (norm_base r (fst v), snd v) with
-         | (BBranch b, []) =>                         (* dirty branch: `db/branch` is the branch's working set *)
-           match branch_working r b with
-           | Some w => match assoc t (d_schema w) with
-                       | Some cols => ans_eqb a (ARows cols (rows_of t (d_data w)))
-                       | None => is_error a
-                       end
-           | None => is_error a
-           end
-         | _ => match a with ARows _ _ | AHist _ _ => want_commit r v t a | _ => true end   (* refusing is fine; rows must be the right ones *)
-         end
-     if revdb_denotes r v then want_commit r v t a
-    else match (norm_base r (fst v), snd v) with
-         | (BBranch b, []) =>                         (* dirty branch: `db/branch` is the branch's working set *)
-           match branch_working r b with
-           | Some w => match assoc t (d_schema w) with
-                       | Some cols => ans_eqb a (ARows cols (rows_of t (d_data w)))
-                       | None => is_error a
-                       end
-           | None => is_error a
-           end
-         | _ => match a with ARows _ _ | AHist _ _ => want_commit r v t a | _ => true end   (* refusing is fine; rows must be the right ones *)
-         end
-m    if revdb_denotes r v then want_commit r v t a
-    else match (norm_base r (fst v), snd v) with
-         | (BBranch b, []) =>                         (* dirty branch: `db/branch` is the branch's working set *)
-           match branch_working r b with
-           | Some w => match assoc t (d_schema w) with
-                       | Some cols => ans_eqb a (ARows cols (rows_of t (d_data w)))
-                       | None => is_error a
-                       end
-           | None => is_error a
-           end
-         | _ => match a with ARows _ _ | AHist _ _ => want_commit r v t a | _ => true end   (* refusing is fine; rows must be the right ones *)
-         end
-a    if revdb_denotes r v then want_commit r v t a
-    else match (norm_base r (fst v), snd v) with
-         | (BBranch b, []) =>                         (* dirty branch: `db/branch` is the branch's working set *)
-           match branch_working r b with
-           | Some w => match assoc t (d_schema w) with
-                       | Some cols => ans_eqb a (ARows cols (rows_of t (d_data w)))
-                       | None => is_error a
-                       end
-           | None => is_error a
-           end
-         | _ => match a with ARows _ _ | AHist _ _ => want_commit r v t a | _ => true end   (* refusing is fine; rows must be the right ones *)
-         end
-t    if revdb_denotes r v then want_commit r v t a
-    else match (norm_base r (fst v), snd v) with
-         | (BBranch b, []) =>                         (* dirty branch: `db/branch` is the branch's working set *)
-           match branch_working r b with
-           | Some w => match assoc t (d_schema w) with
-                       | Some cols => ans_eqb a (ARows cols (rows_of t (d_data w)))
-                       | None => is_error a
-                       end
-           | None => is_error a
-           end
-         | _ => match a with ARows _ _ | AHist _ _ => want_commit r v t a | _ => true end   (* refusing is fine; rows must be the right ones *)
-         end
-c    if revdb_denotes r v then want_commit r v t a
-    else match (norm_base r (fst v), snd v) with
-         | (BBranch b, []) =>                         (* dirty branch: `db/branch` is the branch's working set *)
-           match branch_working r b with
-           | Some w => match assoc t (d_schema w) with
-                       | Some cols => ans_eqb a (ARows cols (rows_of t (d_data w)))
-                       | None => is_error a
-                       end
-           | None => is_error a
-           end
-         | _ => match a with ARows _ _ | AHist _ _ => want_commit r v t a | _ => true end   (* refusing is fine; rows must be the right ones *)
-         end
-h    if revdb_denotes r v then want_commit r v t a
-    else match (norm_base r (fst v), snd v) with
-         | (BBranch b, []) =>                         (* dirty branch: `db/branch` is the branch's working set *)
-           match branch_working r b with
-           | Some w => match assoc t (d_schema w) with
-                       | Some cols => ans_eqb a (ARows cols (rows_of t (d_data w)))
-                       | None => is_error a
-                       end
-           | None => is_error a
-           end
-         | _ => match a with ARows _ _ | AHist _ _ => want_commit r v t a | _ => true end   (* refusing is fine; rows must be the right ones *)
-         end
-     if revdb_denotes r v then want_commit r v t a
-    else match (norm_base r (fst v), snd v) with
-         | (BBranch b, []) =>                         (* dirty branch: `db/branch` is the branch's working set *)
-           match branch_working r b with
-           | Some w => match assoc t (d_schema w) with
-                       | Some cols => ans_eqb a (ARows cols (rows_of t (d_data w)))
-                       | None => is_error a
-                       end
-           | None => is_error a
-           end
-         | _ => match a with ARows _ _ | AHist _ _ => want_commit r v t a | _ => true end   (* refusing is fine; rows must be the right ones *)
-         end
-c    if revdb_denotes r v then want_commit r v t a
-    else match (norm_base r (fst v), snd v) with
-         | (BBranch b, []) =>                         (* dirty branch: `db/branch` is the branch's working set *)
-           match branch_working r b with
-           | Some w => match assoc t (d_schema w) with
-                       | Some cols => ans_eqb a (ARows cols (rows_of t (d_data w)))
-                       | None => is_error a
-                       end
-           | None => is_error a
-           end
-         | _ => match a with ARows _ _ | AHist _ _ => want_commit r v t a | _ => true end   (* refusing is fine; rows must be the right ones *)
-         end
-o    if revdb_denotes r v then want_commit r v t a
-    else match (norm_base r (fst v), snd v) with
-         | (BBranch b, []) =>                         (* dirty branch: `db/branch` is the branch's working set *)
-           match branch_working r b with
-           | Some w => match assoc t (d_schema w) with
-                       | Some cols => ans_eqb a (ARows cols (rows_of t (d_data w)))
-                       | None => is_error a
-                       end
-           | None => is_error a
-           end
-         | _ => match a with ARows _ _ | AHist _ _ => want_commit r v t a | _ => true end   (* refusing is fine; rows must be the right ones *)
-         end
-m    if revdb_denotes r v then want_commit r v t a
-    else match (norm_base r (fst v), snd v) with
-         | (BBranch b, []) =>                         (* dirty branch: `db/branch` is the branch's working set *)
-           match branch_working r b with
-           | Some w => match assoc t (d_schema w) with
-                       | Some cols => ans_eqb a (ARows cols (rows_of t (d_data w)))
-                       | None => is_error a
-                       end
-           | None => is_error a
-           end
-         | _ => match a with ARows _ _ | AHist _ _ => want_commit r v t a | _ => true end   (* refusing is fine; rows must be the right ones *)
-         end
-m    if revdb_denotes r v then want_commit r v t a
-    else match (norm_base r (fst v), snd v) with
-         | (BBranch b, []) =>                         (* dirty branch: `db/branch` is the branch's working set *)
-           match branch_working r b with
-           | Some w => match assoc t (d_schema w) with
-                       | Some cols => ans_eqb a (ARows cols (rows_of t (d_data w)))
-                       | None => is_error a
-                       end
-           | None => is_error a
-           end
-         | _ => match a with ARows _ _ | AHist _ _ => want_commit r v t a | _ => true end   (* refusing is fine; rows must be the right ones *)
-         end
-i    if revdb_denotes r v then want_commit r v t a
-    else match (norm_base r (fst v), snd v) with
-         | (BBranch b, []) =>                         (* dirty branch: `db/branch` is the branch's working set *)
-           match branch_working r b with
-           | Some w => match assoc t (d_schema w) with
-                       | Some cols => ans_eqb a (ARows cols (rows_of t (d_data w)))
-                       | None => is_error a
-                       end
-           | None => is_error a
-           end
-         | _ => match a with ARows _ _ | AHist _ _ => want_commit r v t a | _ => true end   (* refusing is fine; rows must be the right ones *)
-         end
-t    if revdb_denotes r v then want_commit r v t a
-    else match (norm_base r (fst v), snd v) with
-         | (BBranch b, []) =>                         (* dirty branch: `db/branch` is the branch's working set *)
-           match branch_working r b with
-           | Some w => match assoc t (d_schema w) with
-                       | Some cols => ans_eqb a (ARows cols (rows_of t (d_data w)))
-                       | None => is_error a
-                       end
-           | None => is_error a
-           end
-         | _ => match a with ARows _ _ | AHist _ _ => want_commit r v t a | _ => true end   (* refusing is fine; rows must be the right ones *)
-         end
-_    if revdb_denotes r v then want_commit r v t a
-    else match (norm_base r (fst v), snd v) with
-         | (BBranch b, []) =>                         (* dirty branch: `db/branch` is the branch's working set *)
-           match branch_working r b with
-           | Some w => match assoc t (d_schema w) with
-                       | Some cols => ans_eqb a (ARows cols (rows_of t (d_data w)))
-                       | None => is_error a
-                       end
-           | None => is_error a
-           end
-         | _ => match a with ARows _ _ | AHist _ _ => want_commit r v t a | _ => true end   (* refusing is fine; rows must be the right ones *)
-         end
-a    if revdb_denotes r v then want_commit r v t a
-    else match (norm_base r (fst v), snd v) with
-         | (BBranch b, []) =>                         (* dirty branch: `db/branch` is the branch's working set *)
-           match branch_working r b with
-           | Some w => match assoc t (d_schema w) with
-                       | Some cols => ans_eqb a (ARows cols (rows_of t (d_data w)))
-                       | None => is_error a
-                       end
-           | None => is_error a
-           end
-         | _ => match a with ARows _ _ | AHist _ _ => want_commit r v t a | _ => true end   (* refusing is fine; rows must be the right ones *)
-         end
-t    if revdb_denotes r v then want_commit r v t a
-    else match (norm_base r (fst v), snd v) with
-         | (BBranch b, []) =>                         (* dirty branch: `db/branch` is the branch's working set *)
-           match branch_working r b with
-           | Some w => match assoc t (d_schema w) with
-                       | Some cols => ans_eqb a (ARows cols (rows_of t (d_data w)))
-                       | None => is_error a
-                       end
-           | None => is_error a
-           end
-         | _ => match a with ARows _ _ | AHist _ _ => want_commit r v t a | _ => true end   (* refusing is fine; rows must be the right ones *)
-         end
-     if revdb_denotes r v then want_commit r v t a
-    else match (norm_base r (fst v), snd v) with
-         | (BBranch b, []) =>                         (* dirty branch: `db/branch` is the branch's working set *)
-           match branch_working r b with
-           | Some w => match assoc t (d_schema w) with
-                       | Some cols => ans_eqb a (ARows cols (rows_of t (d_data w)))
-                       | None => is_error a
-                       end
-           | None => is_error a
-           end
-         | _ => match a with ARows _ _ | AHist _ _ => want_commit r v t a | _ => true end   (* refusing is fine; rows must be the right ones *)
-         end
-(    if revdb_denotes r v then want_commit r v t a
-    else match (norm_base r (fst v), snd v) with
-         | (BBranch b, []) =>                         (* dirty branch: `db/branch` is the branch's working set *)
-           match branch_working r b with
-           | Some w => match assoc t (d_schema w) with
-                       | Some cols => ans_eqb a (ARows cols (rows_of t (d_data w)))
-                       | None => is_error a
-                       end
-           | None => is_error a
-           end
-         | _ => match a with ARows _ _ | AHist _ _ => want_commit r v t a | _ => true end   (* refusing is fine; rows must be the right ones *)
-         end
-r    if revdb_denotes r v then want_commit r v t a
-    else match (norm_base r (fst v), snd v) with
-         | (BBranch b, []) =>                         (* dirty branch: `db/branch` is the branch's working set *)
-           match branch_working r b with
-           | Some w => match assoc t (d_schema w) with
-                       | Some cols => ans_eqb a (ARows cols (rows_of t (d_data w)))
-                       | None => is_error a
-                       end
-           | None => is_error a
-           end
-         | _ => match a with ARows _ _ | AHist _ _ => want_commit r v t a | _ => true end   (* refusing is fine; rows must be the right ones *)
-         end
-_    if revdb_denotes r v then want_commit r v t a
-    else match (norm_base r (fst v), snd v) with
-         | (BBranch b, []) =>                         (* dirty branch: `db/branch` is the branch's working set *)
-           match branch_working r b with
-           | Some w => match assoc t (d_schema w) with
-                       | Some cols => ans_eqb a (ARows cols (rows_of t (d_data w)))
-                       | None => is_error a
-                       end
-           | None => is_error a
-           end
-         | _ => match a with ARows _ _ | AHist _ _ => want_commit r v t a | _ => true end   (* refusing is fine; rows must be the right ones *)
-         end
-h    if revdb_denotes r v then want_commit r v t a
-    else match (norm_base r (fst v), snd v) with
-         | (BBranch b, []) =>                         (* dirty branch: `db/branch` is the branch's working set *)
-           match branch_working r b with
-           | Some w => match assoc t (d_schema w) with
-                       | Some cols => ans_eqb a (ARows cols (rows_of t (d_data w)))
-                       | None => is_error a
-                       end
-           | None => is_error a
-           end
-         | _ => match a with ARows _ _ | AHist _ _ => want_commit r v t a | _ => true end   (* refusing is fine; rows must be the right ones *)
-         end
-i    if revdb_denotes r v then want_commit r v t a
-    else match (norm_base r (fst v), snd v) with
-         | (BBranch b, []) =>                         (* dirty branch: `db/branch` is the branch's working set *)
-           match branch_working r b with
-           | Some w => match assoc t (d_schema w) with
-                       | Some cols => ans_eqb a (ARows cols (rows_of t (d_data w)))
-                       | None => is_error a
-                       end
-           | None => is_error a
-           end
-         | _ => match a with ARows _ _ | AHist _ _ => want_commit r v t a | _ => true end   (* refusing is fine; rows must be the right ones *)
-         end
-s    if revdb_denotes r v then want_commit r v t a
-    else match (norm_base r (fst v), snd v) with
-         | (BBranch b, []) =>                         (* dirty branch: `db/branch` is the branch's working set *)
-           match branch_working r b with
-           | Some w => match assoc t (d_schema w) with
-                       | Some cols => ans_eqb a (ARows cols (rows_of t (d_data w)))
-                       | None => is_error a
-                       end
-           | None => is_error a
-           end
-         | _ => match a with ARows _ _ | AHist _ _ => want_commit r v t a | _ => true end   (* refusing is fine; rows must be the right ones *)
-         end
-t    if revdb_denotes r v then want_commit r v t a
-    else match (norm_base r (fst v), snd v) with
-         | (BBranch b, []) =>                         (* dirty branch: `db/branch` is the branch's working set *)
-           match branch_working r b with
-           | Some w => match assoc t (d_schema w) with
-                       | Some cols => ans_eqb a (ARows cols (rows_of t (d_data w)))
-                       | None => is_error a
-                       end
-           | None => is_error a
-           end
-         | _ => match a with ARows _ _ | AHist _ _ => want_commit r v t a | _ => true end   (* refusing is fine; rows must be the right ones *)
-         end
-     if revdb_denotes r v then want_commit r v t a
-    else match (norm_base r (fst v), snd v) with
-         | (BBranch b, []) =>                         (* dirty branch: `db/branch` is the branch's working set *)
-           match branch_working r b with
-           | Some w => match assoc t (d_schema w) with
-                       | Some cols => ans_eqb a (ARows cols (rows_of t (d_data w)))
-                       | None => is_error a
-                       end
-           | None => is_error a
-           end
-         | _ => match a with ARows _ _ | AHist _ _ => want_commit r v t a | _ => true end   (* refusing is fine; rows must be the right ones *)
-         end
-r    if revdb_denotes r v then want_commit r v t a
-    else match (norm_base r (fst v), snd v) with
-         | (BBranch b, []) =>                         (* dirty branch: `db/branch` is the branch's working set *)
-           match branch_working r b with
-           | Some w => match assoc t (d_schema w) with
-                       | Some cols => ans_eqb a (ARows cols (rows_of t (d_data w)))
-                       | None => is_error a
-                       end
-           | None => is_error a
-           end
-         | _ => match a with ARows _ _ | AHist _ _ => want_commit r v t a | _ => true end   (* refusing is fine; rows must be the right ones *)
-         end
-)    if revdb_denotes r v then want_commit r v t a
-    else match (norm_base r (fst v), snd v) with
-         | (BBranch b, []) =>                         (* dirty branch: `db/branch` is the branch's working set *)
-           match branch_working r b with
-           | Some w => match assoc t (d_schema w) with
-                       | Some cols => ans_eqb a (ARows cols (rows_of t (d_data w)))
-                       | None => is_error a
-                       end
-           | None => is_error a
-           end
-         | _ => match a with ARows _ _ | AHist _ _ => want_commit r v t a | _ => true end   (* refusing is fine; rows must be the right ones *)
-         end
-     if revdb_denotes r v then want_commit r v t a
-    else match (norm_base r (fst v), snd v) with
-         | (BBranch b, []) =>                         (* dirty branch: `db/branch` is the branch's working set *)
-           match branch_working r b with
-           | Some w => match assoc t (d_schema w) with
-                       | Some cols => ans_eqb a (ARows cols (rows_of t (d_data w)))
-                       | None => is_error a
-                       end
-           | None => is_error a
-           end
-         | _ => match a with ARows _ _ | AHist _ _ => want_commit r v t a | _ => true end   (* refusing is fine; rows must be the right ones *)
-         end
-i    if revdb_denotes r v then want_commit r v t a
-    else match (norm_base r (fst v), snd v) with
-         | (BBranch b, []) =>                         (* dirty branch: `db/branch` is the branch's working set *)
-           match branch_working r b with
-           | Some w => match assoc t (d_schema w) with
-                       | Some cols => ans_eqb a (ARows cols (rows_of t (d_data w)))
-                       | None => is_error a
-                       end
-           | None => is_error a
-           end
-         | _ => match a with ARows _ _ | AHist _ _ => want_commit r v t a | _ => true end   (* refusing is fine; rows must be the right ones *)
-         end
-     if revdb_denotes r v then want_commit r v t a
-    else match (norm_base r (fst v), snd v) with
-         | (BBranch b, []) =>                         (* dirty branch: `db/branch` is the branch's working set *)
-           match branch_working r b with
-           | Some w => match assoc t (d_schema w) with
-                       | Some cols => ans_eqb a (ARows cols (rows_of t (d_data w)))
-                       | None => is_error a
-                       end
-           | None => is_error a
-           end
-         | _ => match a with ARows _ _ | AHist _ _ => want_commit r v t a | _ => true end   (* refusing is fine; rows must be the right ones *)
-         end
-w    if revdb_denotes r v then want_commit r v t a
-    else match (norm_base r (fst v), snd v) with
-         | (BBranch b, []) =>                         (* dirty branch: `db/branch` is the branch's working set *)
-           match branch_working r b with
-           | Some w => match assoc t (d_schema w) with
-                       | Some cols => ans_eqb a (ARows cols (rows_of t (d_data w)))
-                       | None => is_error a
-                       end
-           | None => is_error a
-           end
-         | _ => match a with ARows _ _ | AHist _ _ => want_commit r v t a | _ => true end   (* refusing is fine; rows must be the right ones *)
-         end
-i    if revdb_denotes r v then want_commit r v t a
-    else match (norm_base r (fst v), snd v) with
-         | (BBranch b, []) =>                         (* dirty branch: `db/branch` is the branch's working set *)
-           match branch_working r b with
-           | Some w => match assoc t (d_schema w) with
-                       | Some cols => ans_eqb a (ARows cols (rows_of t (d_data w)))
-                       | None => is_error a
-                       end
-           | None => is_error a
-           end
-         | _ => match a with ARows _ _ | AHist _ _ => want_commit r v t a | _ => true end   (* refusing is fine; rows must be the right ones *)
-         end
-t    if revdb_denotes r v then want_commit r v t a
-    else match (norm_base r (fst v), snd v) with
-         | (BBranch b, []) =>                         (* dirty branch: `db/branch` is the branch's working set *)
-           match branch_working r b with
-           | Some w => match assoc t (d_schema w) with
-                       | Some cols => ans_eqb a (ARows cols (rows_of t (d_data w)))
-                       | None => is_error a
-                       end
-           | None => is_error a
-           end
-         | _ => match a with ARows _ _ | AHist _ _ => want_commit r v t a | _ => true end   (* refusing is fine; rows must be the right ones *)
-         end
-h    if revdb_denotes r v then want_commit r v t a
-    else match (norm_base r (fst v), snd v) with
-         | (BBranch b, []) =>                         (* dirty branch: `db/branch` is the branch's working set *)
-           match branch_working r b with
-           | Some w => match assoc t (d_schema w) with
-                       | Some cols => ans_eqb a (ARows cols (rows_of t (d_data w)))
-                       | None => is_error a
-                       end
-           | None => is_error a
-           end
-         | _ => match a with ARows _ _ | AHist _ _ => want_commit r v t a | _ => true end   (* refusing is fine; rows must be the right ones *)
-         end
-
-    if revdb_denotes r v then want_commit r v t a
-    else match (norm_base r (fst v), snd v) with
-         | (BBranch b, []) =>                         (* dirty branch: `db/branch` is the branch's working set *)
-           match branch_working r b with
-           | Some w => match assoc t (d_schema w) with
-                       | Some cols => ans_eqb a (ARows cols (rows_of t (d_data w)))
-                       | None => is_error a
-                       end
-           | None => is_error a
-           end
-         | _ => match a with ARows _ _ | AHist _ _ => want_commit r v t a | _ => true end   (* refusing is fine; rows must be the right ones *)
-         end
-     if revdb_denotes r v then want_commit r v t a
-    else match (norm_base r (fst v), snd v) with
-         | (BBranch b, []) =>                         (* dirty branch: `db/branch` is the branch's working set *)
-           match branch_working r b with
-           | Some w => match assoc t (d_schema w) with
-                       | Some cols => ans_eqb a (ARows cols (rows_of t (d_data w)))
-                       | None => is_error a
-                       end
-           | None => is_error a
-           end
-         | _ => match a with ARows _ _ | AHist _ _ => want_commit r v t a | _ => true end   (* refusing is fine; rows must be the right ones *)
-         end
-     if revdb_denotes r v then want_commit r v t a
-    else match (norm_base r (fst v), snd v) with
-         | (BBranch b, []) =>                         (* dirty branch: `db/branch` is the branch's working set *)
-           match branch_working r b with
-           | Some w => match assoc t (d_schema w) with
-                       | Some cols => ans_eqb a (ARows cols (rows_of t (d_data w)))
-                       | None => is_error a
-                       end
-           | None => is_error a
-           end
-         | _ => match a with ARows _ _ | AHist _ _ => want_commit r v t a | _ => true end   (* refusing is fine; rows must be the right ones *)
-         end
-     if revdb_denotes r v then want_commit r v t a
-    else match (norm_base r (fst v), snd v) with
-         | (BBranch b, []) =>                         (* dirty branch: `db/branch` is the branch's working set *)
-           match branch_working r b with
-           | Some w => match assoc t (d_schema w) with
-                       | Some cols => ans_eqb a (ARows cols (rows_of t (d_data w)))
-                       | None => is_error a
-                       end
-           | None => is_error a
-           end
-         | _ => match a with ARows _ _ | AHist _ _ => want_commit r v t a | _ => true end   (* refusing is fine; rows must be the right ones *)
-         end
-     if revdb_denotes r v then want_commit r v t a
-    else match (norm_base r (fst v), snd v) with
-         | (BBranch b, []) =>                         (* dirty branch: `db/branch` is the branch's working set *)
-           match branch_working r b with
-           | Some w => match assoc t (d_schema w) with
-                       | Some cols => ans_eqb a (ARows cols (rows_of t (d_data w)))
-                       | None => is_error a
-                       end
-           | None => is_error a
-           end
-         | _ => match a with ARows _ _ | AHist _ _ => want_commit r v t a | _ => true end   (* refusing is fine; rows must be the right ones *)
-         end
-     if revdb_denotes r v then want_commit r v t a
-    else match (norm_base r (fst v), snd v) with
-         | (BBranch b, []) =>                         (* dirty branch: `db/branch` is the branch's working set *)
-           match branch_working r b with
-           | Some w => match assoc t (d_schema w) with
-                       | Some cols => ans_eqb a (ARows cols (rows_of t (d_data w)))
-                       | None => is_error a
-                       end
-           | None => is_error a
-           end
-         | _ => match a with ARows _ _ | AHist _ _ => want_commit r v t a | _ => true end   (* refusing is fine; rows must be the right ones *)
-         end
-     if revdb_denotes r v then want_commit r v t a
-    else match (norm_base r (fst v), snd v) with
-         | (BBranch b, []) =>                         (* dirty branch: `db/branch` is the branch's working set *)
-           match branch_working r b with
-           | Some w => match assoc t (d_schema w) with
-                       | Some cols => ans_eqb a (ARows cols (rows_of t (d_data w)))
-                       | None => is_error a
-                       end
-           | None => is_error a
-           end
-         | _ => match a with ARows _ _ | AHist _ _ => want_commit r v t a | _ => true end   (* refusing is fine; rows must be the right ones *)
-         end
-     if revdb_denotes r v then want_commit r v t a
-    else match (norm_base r (fst v), snd v) with
-         | (BBranch b, []) =>                         (* dirty branch: `db/branch` is the branch's working set *)
-           match branch_working r b with
-           | Some w => match assoc t (d_schema w) with
-                       | Some cols => ans_eqb a (ARows cols (rows_of t (d_data w)))
-                       | None => is_error a
-                       end
-           | None => is_error a
-           end
-         | _ => match a with ARows _ _ | AHist _ _ => want_commit r v t a | _ => true end   (* refusing is fine; rows must be the right ones *)
-         end
-     if revdb_denotes r v then want_commit r v t a
-    else match (norm_base r (fst v), snd v) with
-         | (BBranch b, []) =>                         (* dirty branch: `db/branch` is the branch's working set *)
-           match branch_working r b with
-           | Some w => match assoc t (d_schema w) with
-                       | Some cols => ans_eqb a (ARows cols (rows_of t (d_data w)))
-                       | None => is_error a
-                       end
-           | None => is_error a
-           end
-         | _ => match a with ARows _ _ | AHist _ _ => want_commit r v t a | _ => true end   (* refusing is fine; rows must be the right ones *)
-         end
-     if revdb_denotes r v then want_commit r v t a
-    else match (norm_base r (fst v), snd v) with
-         | (BBranch b, []) =>                         (* dirty branch: `db/branch` is the branch's working set *)
-           match branch_working r b with
-           | Some w => match assoc t (d_schema w) with
-                       | Some cols => ans_eqb a (ARows cols (rows_of t (d_data w)))
-                       | None => is_error a
-                       end
-           | None => is_error a
-           end
-         | _ => match a with ARows _ _ | AHist _ _ => want_commit r v t a | _ => true end   (* refusing is fine; rows must be the right ones *)
-         end
-     if revdb_denotes r v then want_commit r v t a
-    else match (norm_base r (fst v), snd v) with
-         | (BBranch b, []) =>                         (* dirty branch: `db/branch` is the branch's working set *)
-           match branch_working r b with
-           | Some w => match assoc t (d_schema w) with
-                       | Some cols => ans_eqb a (ARows cols (rows_of t (d_data w)))
-                       | None => is_error a
-                       end
-           | None => is_error a
-           end
-         | _ => match a with ARows _ _ | AHist _ _ => want_commit r v t a | _ => true end   (* refusing is fine; rows must be the right ones *)
-         end
-     if revdb_denotes r v then want_commit r v t a
-    else match (norm_base r (fst v), snd v) with
-         | (BBranch b, []) =>                         (* dirty branch: `db/branch` is the branch's working set *)
-           match branch_working r b with
-           | Some w => match assoc t (d_schema w) with
-                       | Some cols => ans_eqb a (ARows cols (rows_of t (d_data w)))
-                       | None => is_error a
-                       end
-           | None => is_error a
-           end
-         | _ => match a with ARows _ _ | AHist _ _ => want_commit r v t a | _ => true end   (* refusing is fine; rows must be the right ones *)
-         end
-     if revdb_denotes r v then want_commit r v t a
-    else match (norm_base r (fst v), snd v) with
-         | (BBranch b, []) =>                         (* dirty branch: `db/branch` is the branch's working set *)
-           match branch_working r b with
-           | Some w => match assoc t (d_schema w) with
-                       | Some cols => ans_eqb a (ARows cols (rows_of t (d_data w)))
-                       | None => is_error a
-                       end
-           | None => is_error a
-           end
-         | _ => match a with ARows _ _ | AHist _ _ => want_commit r v t a | _ => true end   (* refusing is fine; rows must be the right ones *)
-         end
-     if revdb_denotes r v then want_commit r v t a
-    else match (norm_base r (fst v), snd v) with
-         | (BBranch b, []) =>                         (* dirty branch: `db/branch` is the branch's working set *)
-           match branch_working r b with
-           | Some w => match assoc t (d_schema w) with
-                       | Some cols => ans_eqb a (ARows cols (rows_of t (d_data w)))
-                       | None => is_error a
-                       end
-           | None => is_error a
-           end
-         | _ => match a with ARows _ _ | AHist _ _ => want_commit r v t a | _ => true end   (* refusing is fine; rows must be the right ones *)
-         end
-     if revdb_denotes r v then want_commit r v t a
-    else match (norm_base r (fst v), snd v) with
-         | (BBranch b, []) =>                         (* dirty branch: `db/branch` is the branch's working set *)
-           match branch_working r b with
-           | Some w => match assoc t (d_schema w) with
-                       | Some cols => ans_eqb a (ARows cols (rows_of t (d_data w)))
-                       | None => is_error a
-                       end
-           | None => is_error a
-           end
-         | _ => match a with ARows _ _ | AHist _ _ => want_commit r v t a | _ => true end   (* refusing is fine; rows must be the right ones *)
-         end
-|    if revdb_denotes r v then want_commit r v t a
-    else match (norm_base r (fst v), snd v) with
-         | (BBranch b, []) =>                         (* dirty branch: `db/branch` is the branch's working set *)
-           match branch_working r b with
-           | Some w => match assoc t (d_schema w) with
-                       | Some cols => ans_eqb a (ARows cols (rows_of t (d_data w)))
-                       | None => is_error a
-                       end
-           | None => is_error a
-           end
-         | _ => match a with ARows _ _ | AHist _ _ => want_commit r v t a | _ => true end   (* refusing is fine; rows must be the right ones *)
-         end
-     if revdb_denotes r v then want_commit r v t a
-    else match (norm_base r (fst v), snd v) with
-         | (BBranch b, []) =>                         (* dirty branch: `db/branch` is the branch's working set *)
-           match branch_working r b with
-           | Some w => match assoc t (d_schema w) with
-                       | Some cols => ans_eqb a (ARows cols (rows_of t (d_data w)))
-                       | None => is_error a
-                       end
-           | None => is_error a
-           end
-         | _ => match a with ARows _ _ | AHist _ _ => want_commit r v t a | _ => true end   (* refusing is fine; rows must be the right ones *)
-         end
-S    if revdb_denotes r v then want_commit r v t a
-    else match (norm_base r (fst v), snd v) with
-         | (BBranch b, []) =>                         (* dirty branch: `db/branch` is the branch's working set *)
-           match branch_working r b with
-           | Some w => match assoc t (d_schema w) with
-                       | Some cols => ans_eqb a (ARows cols (rows_of t (d_data w)))
-                       | None => is_error a
-                       end
-           | None => is_error a
-           end
-         | _ => match a with ARows _ _ | AHist _ _ => want_commit r v t a | _ => true end   (* refusing is fine; rows must be the right ones *)
-         end
-o    if revdb_denotes r v then want_commit r v t a
-    else match (norm_base r (fst v), snd v) with
-         | (BBranch b, []) =>                         (* dirty branch: `db/branch` is the branch's working set *)
-           match branch_working r b with
-           | Some w => match assoc t (d_schema w) with
-                       | Some cols => ans_eqb a (ARows cols (rows_of t (d_data w)))
-                       | None => is_error a
-                       end
-           | None => is_error a
-           end
-         | _ => match a with ARows _ _ | AHist _ _ => want_commit r v t a | _ => true end   (* refusing is fine; rows must be the right ones *)
-         end
-m    if revdb_denotes r v then want_commit r v t a
-    else match (norm_base r (fst v), snd v) with
-         | (BBranch b, []) =>                         (* dirty branch: `db/branch` is the branch's working set *)
-           match branch_working r b with
-           | Some w => match assoc t (d_schema w) with
-                       | Some cols => ans_eqb a (ARows cols (rows_of t (d_data w)))
-                       | None => is_error a
-                       end
-           | None => is_error a
-           end
-         | _ => match a with ARows _ _ | AHist _ _ => want_commit r v t a | _ => true end   (* refusing is fine; rows must be the right ones *)
-         end
-e    if revdb_denotes r v then want_commit r v t a
-    else match (norm_base r (fst v), snd v) with
-         | (BBranch b, []) =>                         (* dirty branch: `db/branch` is the branch's working set *)
-           match branch_working r b with
-           | Some w => match assoc t (d_schema w) with
-                       | Some cols => ans_eqb a (ARows cols (rows_of t (d_data w)))
-                       | None => is_error a
-                       end
-           | None => is_error a
-           end
-         | _ => match a with ARows _ _ | AHist _ _ => want_commit r v t a | _ => true end   (* refusing is fine; rows must be the right ones *)
-         end
-     if revdb_denotes r v then want_commit r v t a
-    else match (norm_base r (fst v), snd v) with
-         | (BBranch b, []) =>                         (* dirty branch: `db/branch` is the branch's working set *)
-           match branch_working r b with
-           | Some w => match assoc t (d_schema w) with
-                       | Some cols => ans_eqb a (ARows cols (rows_of t (d_data w)))
-                       | None => is_error a
-                       end
-           | None => is_error a
-           end
-         | _ => match a with ARows _ _ | AHist _ _ => want_commit r v t a | _ => true end   (* refusing is fine; rows must be the right ones *)
-         end
-c    if revdb_denotes r v then want_commit r v t a
-    else match (norm_base r (fst v), snd v) with
-         | (BBranch b, []) =>                         (* dirty branch: `db/branch` is the branch's working set *)
-           match branch_working r b with
-           | Some w => match assoc t (d_schema w) with
-                       | Some cols => ans_eqb a (ARows cols (rows_of t (d_data w)))
-                       | None => is_error a
-                       end
-           | None => is_error a
-           end
-         | _ => match a with ARows _ _ | AHist _ _ => want_commit r v t a | _ => true end   (* refusing is fine; rows must be the right ones *)
-         end
-     if revdb_denotes r v then want_commit r v t a
-    else match (norm_base r (fst v), snd v) with
-         | (BBranch b, []) =>                         (* dirty branch: `db/branch` is the branch's working set *)
-           match branch_working r b with
-           | Some w => match assoc t (d_schema w) with
-                       | Some cols => ans_eqb a (ARows cols (rows_of t (d_data w)))
-                       | None => is_error a
-                       end
-           | None => is_error a
-           end
-         | _ => match a with ARows _ _ | AHist _ _ => want_commit r v t a | _ => true end   (* refusing is fine; rows must be the right ones *)
-         end
-=    if revdb_denotes r v then want_commit r v t a
-    else match (norm_base r (fst v), snd v) with
-         | (BBranch b, []) =>                         (* dirty branch: `db/branch` is the branch's working set *)
-           match branch_working r b with
-           | Some w => match assoc t (d_schema w) with
-                       | Some cols => ans_eqb a (ARows cols (rows_of t (d_data w)))
-                       | None => is_error a
-                       end
-           | None => is_error a
-           end
-         | _ => match a with ARows _ _ | AHist _ _ => want_commit r v t a | _ => true end   (* refusing is fine; rows must be the right ones *)
-         end
->    if revdb_denotes r v then want_commit r v t a
-    else match (norm_base r (fst v), snd v) with
-         | (BBranch b, []) =>                         (* dirty branch: `db/branch` is the branch's working set *)
-           match branch_working r b with
-           | Some w => match assoc t (d_schema w) with
-                       | Some cols => ans_eqb a (ARows cols (rows_of t (d_data w)))
-                       | None => is_error a
-                       end
-           | None => is_error a
-           end
-         | _ => match a with ARows _ _ | AHist _ _ => want_commit r v t a | _ => true end   (* refusing is fine; rows must be the right ones *)
-         end
-     if revdb_denotes r v then want_commit r v t a
-    else match (norm_base r (fst v), snd v) with
-         | (BBranch b, []) =>                         (* dirty branch: `db/branch` is the branch's working set *)
-           match branch_working r b with
-           | Some w => match assoc t (d_schema w) with
-                       | Some cols => ans_eqb a (ARows cols (rows_of t (d_data w)))
-                       | None => is_error a
-                       end
-           | None => is_error a
-           end
-         | _ => match a with ARows _ _ | AHist _ _ => want_commit r v t a | _ => true end   (* refusing is fine; rows must be the right ones *)
-         end
-m    if revdb_denotes r v then want_commit r v t a
-    else match (norm_base r (fst v), snd v) with
-         | (BBranch b, []) =>                         (* dirty branch: `db/branch` is the branch's working set *)
-           match branch_working r b with
-           | Some w => match assoc t (d_schema w) with
-                       | Some cols => ans_eqb a (ARows cols (rows_of t (d_data w)))
-                       | None => is_error a
-                       end
-           | None => is_error a
-           end
-         | _ => match a with ARows _ _ | AHist _ _ => want_commit r v t a | _ => true end   (* refusing is fine; rows must be the right ones *)
-         end
-a    if revdb_denotes r v then want_commit r v t a
-    else match (norm_base r (fst v), snd v) with
-         | (BBranch b, []) =>                         (* dirty branch: `db/branch` is the branch's working set *)
-           match branch_working r b with
-           | Some w => match assoc t (d_schema w) with
-                       | Some cols => ans_eqb a (ARows cols (rows_of t (d_data w)))
-                       | None => is_error a
-                       end
-           | None => is_error a
-           end
-         | _ => match a with ARows _ _ | AHist _ _ => want_commit r v t a | _ => true end   (* refusing is fine; rows must be the right ones *)
-         end
-t    if revdb_denotes r v then want_commit r v t a
-    else match (norm_base r (fst v), snd v) with
-         | (BBranch b, []) =>                         (* dirty branch: `db/branch` is the branch's working set *)
-           match branch_working r b with
-           | Some w => match assoc t (d_schema w) with
-                       | Some cols => ans_eqb a (ARows cols (rows_of t (d_data w)))
-                       | None => is_error a
-                       end
-           | None => is_error a
-           end
-         | _ => match a with ARows _ _ | AHist _ _ => want_commit r v t a | _ => true end   (* refusing is fine; rows must be the right ones *)
-         end
-c    if revdb_denotes r v then want_commit r v t a
-    else match (norm_base r (fst v), snd v) with
-         | (BBranch b, []) =>                         (* dirty branch: `db/branch` is the branch's working set *)
-           match branch_working r b with
-           | Some w => match assoc t (d_schema w) with
-                       | Some cols => ans_eqb a (ARows cols (rows_of t (d_data w)))
-                       | None => is_error a
-                       end
-           | None => is_error a
-           end
-         | _ => match a with ARows _ _ | AHist _ _ => want_commit r v t a | _ => true end   (* refusing is fine; rows must be the right ones *)
-         end
-h    if revdb_denotes r v then want_commit r v t a
-    else match (norm_base r (fst v), snd v) with
-         | (BBranch b, []) =>                         (* dirty branch: `db/branch` is the branch's working set *)
-           match branch_working r b with
-           | Some w => match assoc t (d_schema w) with
-                       | Some cols => ans_eqb a (ARows cols (rows_of t (d_data w)))
-                       | None => is_error a
-                       end
-           | None => is_error a
-           end
-         | _ => match a with ARows _ _ | AHist _ _ => want_commit r v t a | _ => true end   (* refusing is fine; rows must be the right ones *)
-         end
-     if revdb_denotes r v then want_commit r v t a
-    else match (norm_base r (fst v), snd v) with
-         | (BBranch b, []) =>                         (* dirty branch: `db/branch` is the branch's working set *)
-           match branch_working r b with
-           | Some w => match assoc t (d_schema w) with
-                       | Some cols => ans_eqb a (ARows cols (rows_of t (d_data w)))
-                       | None => is_error a
-                       end
-           | None => is_error a
-           end
-         | _ => match a with ARows _ _ | AHist _ _ => want_commit r v t a | _ => true end   (* refusing is fine; rows must be the right ones *)
-         end
-a    if revdb_denotes r v then want_commit r v t a
-    else match (norm_base r (fst v), snd v) with
-         | (BBranch b, []) =>                         (* dirty branch: `db/branch` is the branch's working set *)
-           match branch_working r b with
-           | Some w => match assoc t (d_schema w) with
-                       | Some cols => ans_eqb a (ARows cols (rows_of t (d_data w)))
-                       | None => is_error a
-                       end
-           | None => is_error a
-           end
-         | _ => match a with ARows _ _ | AHist _ _ => want_commit r v t a | _ => true end   (* refusing is fine; rows must be the right ones *)
-         end
-s    if revdb_denotes r v then want_commit r v t a
-    else match (norm_base r (fst v), snd v) with
-         | (BBranch b, []) =>                         (* dirty branch: `db/branch` is the branch's working set *)
-           match branch_working r b with
-           | Some w => match assoc t (d_schema w) with
-                       | Some cols => ans_eqb a (ARows cols (rows_of t (d_data w)))
-                       | None => is_error a
-                       end
-           | None => is_error a
-           end
-         | _ => match a with ARows _ _ | AHist _ _ => want_commit r v t a | _ => true end   (* refusing is fine; rows must be the right ones *)
-         end
-s    if revdb_denotes r v then want_commit r v t a
-    else match (norm_base r (fst v), snd v) with
-         | (BBranch b, []) =>                         (* dirty branch: `db/branch` is the branch's working set *)
-           match branch_working r b with
-           | Some w => match assoc t (d_schema w) with
-                       | Some cols => ans_eqb a (ARows cols (rows_of t (d_data w)))
-                       | None => is_error a
-                       end
-           | None => is_error a
-           end
-         | _ => match a with ARows _ _ | AHist _ _ => want_commit r v t a | _ => true end   (* refusing is fine; rows must be the right ones *)
-         end
-o    if revdb_denotes r v then want_commit r v t a
-    else match (norm_base r (fst v), snd v) with
-         | (BBranch b, []) =>                         (* dirty branch: `db/branch` is the branch's working set *)
-           match branch_working r b with
-           | Some w => match assoc t (d_schema w) with
-                       | Some cols => ans_eqb a (ARows cols (rows_of t (d_data w)))
-                       | None => is_error a
-                       end
-           | None => is_error a
-           end
-         | _ => match a with ARows _ _ | AHist _ _ => want_commit r v t a | _ => true end   (* refusing is fine; rows must be the right ones *)
-         end
-c    if revdb_denotes r v then want_commit r v t a
-    else match (norm_base r (fst v), snd v) with
-         | (BBranch b, []) =>                         (* dirty branch: `db/branch` is the branch's working set *)
-           match branch_working r b with
-           | Some w => match assoc t (d_schema w) with
-                       | Some cols => ans_eqb a (ARows cols (rows_of t (d_data w)))
-                       | None => is_error a
-                       end
-           | None => is_error a
-           end
-         | _ => match a with ARows _ _ | AHist _ _ => want_commit r v t a | _ => true end   (* refusing is fine; rows must be the right ones *)
-         end
-     if revdb_denotes r v then want_commit r v t a
-    else match (norm_base r (fst v), snd v) with
-         | (BBranch b, []) =>                         (* dirty branch: `db/branch` is the branch's working set *)
-           match branch_working r b with
-           | Some w => match assoc t (d_schema w) with
-                       | Some cols => ans_eqb a (ARows cols (rows_of t (d_data w)))
-                       | None => is_error a
-                       end
-           | None => is_error a
-           end
-         | _ => match a with ARows _ _ | AHist _ _ => want_commit r v t a | _ => true end   (* refusing is fine; rows must be the right ones *)
-         end
-t    if revdb_denotes r v then want_commit r v t a
-    else match (norm_base r (fst v), snd v) with
-         | (BBranch b, []) =>                         (* dirty branch: `db/branch` is the branch's working set *)
-           match branch_working r b with
-           | Some w => match assoc t (d_schema w) with
-                       | Some cols => ans_eqb a (ARows cols (rows_of t (d_data w)))
-                       | None => is_error a
-                       end
-           | None => is_error a
-           end
-         | _ => match a with ARows _ _ | AHist _ _ => want_commit r v t a | _ => true end   (* refusing is fine; rows must be the right ones *)
-         end
-     if revdb_denotes r v then want_commit r v t a
-    else match (norm_base r (fst v), snd v) with
-         | (BBranch b, []) =>                         (* dirty branch: `db/branch` is the branch's working set *)
-           match branch_working r b with
-           | Some w => match assoc t (d_schema w) with
-                       | Some cols => ans_eqb a (ARows cols (rows_of t (d_data w)))
-                       | None => is_error a
-                       end
-           | None => is_error a
-           end
-         | _ => match a with ARows _ _ | AHist _ _ => want_commit r v t a | _ => true end   (* refusing is fine; rows must be the right ones *)
-         end
-(    if revdb_denotes r v then want_commit r v t a
-    else match (norm_base r (fst v), snd v) with
-         | (BBranch b, []) =>                         (* dirty branch: `db/branch` is the branch's working set *)
-           match branch_working r b with
-           | Some w => match assoc t (d_schema w) with
-                       | Some cols => ans_eqb a (ARows cols (rows_of t (d_data w)))
-                       | None => is_error a
-                       end
-           | None => is_error a
-           end
-         | _ => match a with ARows _ _ | AHist _ _ => want_commit r v t a | _ => true end   (* refusing is fine; rows must be the right ones *)
-         end
-d    if revdb_denotes r v then want_commit r v t a
-    else match (norm_base r (fst v), snd v) with
-         | (BBranch b, []) =>                         (* dirty branch: `db/branch` is the branch's working set *)
-           match branch_working r b with
-           | Some w => match assoc t (d_schema w) with
-                       | Some cols => ans_eqb a (ARows cols (rows_of t (d_data w)))
-                       | None => is_error a
-                       end
-           | None => is_error a
-           end
-         | _ => match a with ARows _ _ | AHist _ _ => want_commit r v t a | _ => true end   (* refusing is fine; rows must be the right ones *)
-         end
-_    if revdb_denotes r v then want_commit r v t a
-    else match (norm_base r (fst v), snd v) with
-         | (BBranch b, []) =>                         (* dirty branch: `db/branch` is the branch's working set *)
-           match branch_working r b with
-           | Some w => match assoc t (d_schema w) with
-                       | Some cols => ans_eqb a (ARows cols (rows_of t (d_data w)))
-                       | None => is_error a
-                       end
-           | None => is_error a
-           end
-         | _ => match a with ARows _ _ | AHist _ _ => want_commit r v t a | _ => true end   (* refusing is fine; rows must be the right ones *)
-         end
-s    if revdb_denotes r v then want_commit r v t a
-    else match (norm_base r (fst v), snd v) with
-         | (BBranch b, []) =>                         (* dirty branch: `db/branch` is the branch's working set *)
-           match branch_working r b with
-           | Some w => match assoc t (d_schema w) with
-                       | Some cols => ans_eqb a (ARows cols (rows_of t (d_data w)))
-                       | None => is_error a
-                       end
-           | None => is_error a
-           end
-         | _ => match a with ARows _ _ | AHist _ _ => want_commit r v t a | _ => true end   (* refusing is fine; rows must be the right ones *)
-         end
-c    if revdb_denotes r v then want_commit r v t a
-    else match (norm_base r (fst v), snd v) with
-         | (BBranch b, []) =>                         (* dirty branch: `db/branch` is the branch's working set *)
-           match branch_working r b with
-           | Some w => match assoc t (d_schema w) with
-                       | Some cols => ans_eqb a (ARows cols (rows_of t (d_data w)))
-                       | None => is_error a
-                       end
-           | None => is_error a
-           end
-         | _ => match a with ARows _ _ | AHist _ _ => want_commit r v t a | _ => true end   (* refusing is fine; rows must be the right ones *)
-         end
-h    if revdb_denotes r v then want_commit r v t a
-    else match (norm_base r (fst v), snd v) with
-         | (BBranch b, []) =>                         (* dirty branch: `db/branch` is the branch's working set *)
-           match branch_working r b with
-           | Some w => match assoc t (d_schema w) with
-                       | Some cols => ans_eqb a (ARows cols (rows_of t (d_data w)))
-                       | None => is_error a
-                       end
-           | None => is_error a
-           end
-         | _ => match a with ARows _ _ | AHist _ _ => want_commit r v t a | _ => true end   (* refusing is fine; rows must be the right ones *)
-         end
-e    if revdb_denotes r v then want_commit r v t a
-    else match (norm_base r (fst v), snd v) with
-         | (BBranch b, []) =>                         (* dirty branch: `db/branch` is the branch's working set *)
-           match branch_working r b with
-           | Some w => match assoc t (d_schema w) with
-                       | Some cols => ans_eqb a (ARows cols (rows_of t (d_data w)))
-                       | None => is_error a
-                       end
-           | None => is_error a
-           end
-         | _ => match a with ARows _ _ | AHist _ _ => want_commit r v t a | _ => true end   (* refusing is fine; rows must be the right ones *)
-         end
-m    if revdb_denotes r v then want_commit r v t a
-    else match (norm_base r (fst v), snd v) with
-         | (BBranch b, []) =>                         (* dirty branch: `db/branch` is the branch's working set *)
-           match branch_working r b with
-           | Some w => match assoc t (d_schema w) with
-                       | Some cols => ans_eqb a (ARows cols (rows_of t (d_data w)))
-                       | None => is_error a
-                       end
-           | None => is_error a
-           end
-         | _ => match a with ARows _ _ | AHist _ _ => want_commit r v t a | _ => true end   (* refusing is fine; rows must be the right ones *)
-         end
-a    if revdb_denotes r v then want_commit r v t a
-    else match (norm_base r (fst v), snd v) with
-         | (BBranch b, []) =>                         (* dirty branch: `db/branch` is the branch's working set *)
-           match branch_working r b with
-           | Some w => match assoc t (d_schema w) with
-                       | Some cols => ans_eqb a (ARows cols (rows_of t (d_data w)))
-                       | None => is_error a
-                       end
-           | None => is_error a
-           end
-         | _ => match a with ARows _ _ | AHist _ _ => want_commit r v t a | _ => true end   (* refusing is fine; rows must be the right ones *)
-         end
-     if revdb_denotes r v then want_commit r v t a
-    else match (norm_base r (fst v), snd v) with
-         | (BBranch b, []) =>                         (* dirty branch: `db/branch` is the branch's working set *)
-           match branch_working r b with
-           | Some w => match assoc t (d_schema w) with
-                       | Some cols => ans_eqb a (ARows cols (rows_of t (d_data w)))
-                       | None => is_error a
-                       end
-           | None => is_error a
-           end
-         | _ => match a with ARows _ _ | AHist _ _ => want_commit r v t a | _ => true end   (* refusing is fine; rows must be the right ones *)
-         end
-(    if revdb_denotes r v then want_commit r v t a
-    else match (norm_base r (fst v), snd v) with
-         | (BBranch b, []) =>                         (* dirty branch: `db/branch` is the branch's working set *)
-           match branch_working r b with
-           | Some w => match assoc t (d_schema w) with
-                       | Some cols => ans_eqb a (ARows cols (rows_of t (d_data w)))
-                       | None => is_error a
-                       end
-           | None => is_error a
-           end
-         | _ => match a with ARows _ _ | AHist _ _ => want_commit r v t a | _ => true end   (* refusing is fine; rows must be the right ones *)
-         end
-k    if revdb_denotes r v then want_commit r v t a
-    else match (norm_base r (fst v), snd v) with
-         | (BBranch b, []) =>                         (* dirty branch: `db/branch` is the branch's working set *)
-           match branch_working r b with
-           | Some w => match assoc t (d_schema w) with
-                       | Some cols => ans_eqb a (ARows cols (rows_of t (d_data w)))
-                       | None => is_error a
-                       end
-           | None => is_error a
-           end
-         | _ => match a with ARows _ _ | AHist _ _ => want_commit r v t a | _ => true end   (* refusing is fine; rows must be the right ones *)
-         end
-_    if revdb_denotes r v then want_commit r v t a
-    else match (norm_base r (fst v), snd v) with
-         | (BBranch b, []) =>                         (* dirty branch: `db/branch` is the branch's working set *)
-           match branch_working r b with
-           | Some w => match assoc t (d_schema w) with
-                       | Some cols => ans_eqb a (ARows cols (rows_of t (d_data w)))
-                       | None => is_error a
-                       end
-           | None => is_error a
-           end
-         | _ => match a with ARows _ _ | AHist _ _ => want_commit r v t a | _ => true end   (* refusing is fine; rows must be the right ones *)
-         end
-s    if revdb_denotes r v then want_commit r v t a
-    else match (norm_base r (fst v), snd v) with
-         | (BBranch b, []) =>                         (* dirty branch: `db/branch` is the branch's working set *)
-           match branch_working r b with
-           | Some w => match assoc t (d_schema w) with
-                       | Some cols => ans_eqb a (ARows cols (rows_of t (d_data w)))
-                       | None => is_error a
-                       end
-           | None => is_error a
-           end
-         | _ => match a with ARows _ _ | AHist _ _ => want_commit r v t a | _ => true end   (* refusing is fine; rows must be the right ones *)
-         end
-t    if revdb_denotes r v then want_commit r v t a
-    else match (norm_base r (fst v), snd v) with
-         | (BBranch b, []) =>                         (* dirty branch: `db/branch` is the branch's working set *)
-           match branch_working r b with
-           | Some w => match assoc t (d_schema w) with
-                       | Some cols => ans_eqb a (ARows cols (rows_of t (d_data w)))
-                       | None => is_error a
-                       end
-           | None => is_error a
-           end
-         | _ => match a with ARows _ _ | AHist _ _ => want_commit r v t a | _ => true end   (* refusing is fine; rows must be the right ones *)
-         end
-a    if revdb_denotes r v then want_commit r v t a
-    else match (norm_base r (fst v), snd v) with
-         | (BBranch b, []) =>                         (* dirty branch: `db/branch` is the branch's working set *)
-           match branch_working r b with
-           | Some w => match assoc t (d_schema w) with
-                       | Some cols => ans_eqb a (ARows cols (rows_of t (d_data w)))
-                       | None => is_error a
-                       end
-           | None => is_error a
-           end
-         | _ => match a with ARows _ _ | AHist _ _ => want_commit r v t a | _ => true end   (* refusing is fine; rows must be the right ones *)
-         end
-t    if revdb_denotes r v then want_commit r v t a
-    else match (norm_base r (fst v), snd v) with
-         | (BBranch b, []) =>                         (* dirty branch: `db/branch` is the branch's working set *)
-           match branch_working r b with
-           | Some w => match assoc t (d_schema w) with
-                       | Some cols => ans_eqb a (ARows cols (rows_of t (d_data w)))
-                       | None => is_error a
-                       end
-           | None => is_error a
-           end
-         | _ => match a with ARows _ _ | AHist _ _ => want_commit r v t a | _ => true end   (* refusing is fine; rows must be the right ones *)
-         end
-e    if revdb_denotes r v then want_commit r v t a
-    else match (norm_base r (fst v), snd v) with
-         | (BBranch b, []) =>                         (* dirty branch: `db/branch` is the branch's working set *)
-           match branch_working r b with
-           | Some w => match assoc t (d_schema w) with
-                       | Some cols => ans_eqb a (ARows cols (rows_of t (d_data w)))
-                       | None => is_error a
-                       end
-           | None => is_error a
-           end
-         | _ => match a with ARows _ _ | AHist _ _ => want_commit r v t a | _ => true end   (* refusing is fine; rows must be the right ones *)
-         end
-     if revdb_denotes r v then want_commit r v t a
-    else match (norm_base r (fst v), snd v) with
-         | (BBranch b, []) =>                         (* dirty branch: `db/branch` is the branch's working set *)
-           match branch_working r b with
-           | Some w => match assoc t (d_schema w) with
-                       | Some cols => ans_eqb a (ARows cols (rows_of t (d_data w)))
-                       | None => is_error a
-                       end
-           | None => is_error a
-           end
-         | _ => match a with ARows _ _ | AHist _ _ => want_commit r v t a | _ => true end   (* refusing is fine; rows must be the right ones *)
-         end
-c    if revdb_denotes r v then want_commit r v t a
-    else match (norm_base r (fst v), snd v) with
-         | (BBranch b, []) =>                         (* dirty branch: `db/branch` is the branch's working set *)
-           match branch_working r b with
-           | Some w => match assoc t (d_schema w) with
-                       | Some cols => ans_eqb a (ARows cols (rows_of t (d_data w)))
-                       | None => is_error a
-                       end
-           | None => is_error a
-           end
-         | _ => match a with ARows _ _ | AHist _ _ => want_commit r v t a | _ => true end   (* refusing is fine; rows must be the right ones *)
-         end
-)    if revdb_denotes r v then want_commit r v t a
-    else match (norm_base r (fst v), snd v) with
-         | (BBranch b, []) =>                         (* dirty branch: `db/branch` is the branch's working set *)
-           match branch_working r b with
-           | Some w => match assoc t (d_schema w) with
-                       | Some cols => ans_eqb a (ARows cols (rows_of t (d_data w)))
-                       | None => is_error a
-                       end
-           | None => is_error a
-           end
-         | _ => match a with ARows _ _ | AHist _ _ => want_commit r v t a | _ => true end   (* refusing is fine; rows must be the right ones *)
-         end
-)    if revdb_denotes r v then want_commit r v t a
-    else match (norm_base r (fst v), snd v) with
-         | (BBranch b, []) =>                         (* dirty branch: `db/branch` is the branch's working set *)
-           match branch_working r b with
-           | Some w => match assoc t (d_schema w) with
-                       | Some cols => ans_eqb a (ARows cols (rows_of t (d_data w)))
-                       | None => is_error a
-                       end
-           | None => is_error a
-           end
-         | _ => match a with ARows _ _ | AHist _ _ => want_commit r v t a | _ => true end   (* refusing is fine; rows must be the right ones *)
-         end
-     if revdb_denotes r v then want_commit r v t a
-    else match (norm_base r (fst v), snd v) with
-         | (BBranch b, []) =>                         (* dirty branch: `db/branch` is the branch's working set *)
-           match branch_working r b with
-           | Some w => match assoc t (d_schema w) with
-                       | Some cols => ans_eqb a (ARows cols (rows_of t (d_data w)))
-                       | None => is_error a
-                       end
-           | None => is_error a
-           end
-         | _ => match a with ARows _ _ | AHist _ _ => want_commit r v t a | _ => true end   (* refusing is fine; rows must be the right ones *)
-         end
-w    if revdb_denotes r v then want_commit r v t a
-    else match (norm_base r (fst v), snd v) with
-         | (BBranch b, []) =>                         (* dirty branch: `db/branch` is the branch's working set *)
-           match branch_working r b with
-           | Some w => match assoc t (d_schema w) with
-                       | Some cols => ans_eqb a (ARows cols (rows_of t (d_data w)))
-                       | None => is_error a
-                       end
-           | None => is_error a
-           end
-         | _ => match a with ARows _ _ | AHist _ _ => want_commit r v t a | _ => true end   (* refusing is fine; rows must be the right ones *)
-         end
-i    if revdb_denotes r v then want_commit r v t a
-    else match (norm_base r (fst v), snd v) with
-         | (BBranch b, []) =>                         (* dirty branch: `db/branch` is the branch's working set *)
-           match branch_working r b with
-           | Some w => match assoc t (d_schema w) with
-                       | Some cols => ans_eqb a (ARows cols (rows_of t (d_data w)))
-                       | None => is_error a
-                       end
-           | None => is_error a
-           end
-         | _ => match a with ARows _ _ | AHist _ _ => want_commit r v t a | _ => true end   (* refusing is fine; rows must be the right ones *)
-         end
-t    if revdb_denotes r v then want_commit r v t a
-    else match (norm_base r (fst v), snd v) with
-         | (BBranch b, []) =>                         (* dirty branch: `db/branch` is the branch's working set *)
-           match branch_working r b with
-           | Some w => match assoc t (d_schema w) with
-                       | Some cols => ans_eqb a (ARows cols (rows_of t (d_data w)))
-                       | None => is_error a
-                       end
-           | None => is_error a
-           end
-         | _ => match a with ARows _ _ | AHist _ _ => want_commit r v t a | _ => true end   (* refusing is fine; rows must be the right ones *)
-         end
-h    if revdb_denotes r v then want_commit r v t a
-    else match (norm_base r (fst v), snd v) with
-         | (BBranch b, []) =>                         (* dirty branch: `db/branch` is the branch's working set *)
-           match branch_working r b with
-           | Some w => match assoc t (d_schema w) with
-                       | Some cols => ans_eqb a (ARows cols (rows_of t (d_data w)))
-                       | None => is_error a
-                       end
-           | None => is_error a
-           end
-         | _ => match a with ARows _ _ | AHist _ _ => want_commit r v t a | _ => true end   (* refusing is fine; rows must be the right ones *)
-         end
-
-    if revdb_denotes r v then want_commit r v t a
-    else match (norm_base r (fst v), snd v) with
-         | (BBranch b, []) =>                         (* dirty branch: `db/branch` is the branch's working set *)
-           match branch_working r b with
-           | Some w => match assoc t (d_schema w) with
-                       | Some cols => ans_eqb a (ARows cols (rows_of t (d_data w)))
-                       | None => is_error a
-                       end
-           | None => is_error a
-           end
-         | _ => match a with ARows _ _ | AHist _ _ => want_commit r v t a | _ => true end   (* refusing is fine; rows must be the right ones *)
-         end
-     if revdb_denotes r v then want_commit r v t a
-    else match (norm_base r (fst v), snd v) with
-         | (BBranch b, []) =>                         (* dirty branch: `db/branch` is the branch's working set *)
-           match branch_working r b with
-           | Some w => match assoc t (d_schema w) with
-                       | Some cols => ans_eqb a (ARows cols (rows_of t (d_data w)))
-                       | None => is_error a
-                       end
-           | None => is_error a
-           end
-         | _ => match a with ARows _ _ | AHist _ _ => want_commit r v t a | _ => true end   (* refusing is fine; rows must be the right ones *)
-         end
-     if revdb_denotes r v then want_commit r v t a
-    else match (norm_base r (fst v), snd v) with
-         | (BBranch b, []) =>                         (* dirty branch: `db/branch` is the branch's working set *)
-           match branch_working r b with
-           | Some w => match assoc t (d_schema w) with
-                       | Some cols => ans_eqb a (ARows cols (rows_of t (d_data w)))
-                       | None => is_error a
-                       end
-           | None => is_error a
-           end
-         | _ => match a with ARows _ _ | AHist _ _ => want_commit r v t a | _ => true end   (* refusing is fine; rows must be the right ones *)
-         end
-     if revdb_denotes r v then want_commit r v t a
-    else match (norm_base r (fst v), snd v) with
-         | (BBranch b, []) =>                         (* dirty branch: `db/branch` is the branch's working set *)
-           match branch_working r b with
-           | Some w => match assoc t (d_schema w) with
-                       | Some cols => ans_eqb a (ARows cols (rows_of t (d_data w)))
-                       | None => is_error a
-                       end
-           | None => is_error a
-           end
-         | _ => match a with ARows _ _ | AHist _ _ => want_commit r v t a | _ => true end   (* refusing is fine; rows must be the right ones *)
-         end
-     if revdb_denotes r v then want_commit r v t a
-    else match (norm_base r (fst v), snd v) with
-         | (BBranch b, []) =>                         (* dirty branch: `db/branch` is the branch's working set *)
-           match branch_working r b with
-           | Some w => match assoc t (d_schema w) with
-                       | Some cols => ans_eqb a (ARows cols (rows_of t (d_data w)))
-                       | None => is_error a
-                       end
-           | None => is_error a
-           end
-         | _ => match a with ARows _ _ | AHist _ _ => want_commit r v t a | _ => true end   (* refusing is fine; rows must be the right ones *)
-         end
-     if revdb_denotes r v then want_commit r v t a
-    else match (norm_base r (fst v), snd v) with
-         | (BBranch b, []) =>                         (* dirty branch: `db/branch` is the branch's working set *)
-           match branch_working r b with
-           | Some w => match assoc t (d_schema w) with
-                       | Some cols => ans_eqb a (ARows cols (rows_of t (d_data w)))
-                       | None => is_error a
-                       end
-           | None => is_error a
-           end
-         | _ => match a with ARows _ _ | AHist _ _ => want_commit r v t a | _ => true end   (* refusing is fine; rows must be the right ones *)
-         end
-     if revdb_denotes r v then want_commit r v t a
-    else match (norm_base r (fst v), snd v) with
-         | (BBranch b, []) =>                         (* dirty branch: `db/branch` is the branch's working set *)
-           match branch_working r b with
-           | Some w => match assoc t (d_schema w) with
-                       | Some cols => ans_eqb a (ARows cols (rows_of t (d_data w)))
-                       | None => is_error a
-                       end
-           | None => is_error a
-           end
-         | _ => match a with ARows _ _ | AHist _ _ => want_commit r v t a | _ => true end   (* refusing is fine; rows must be the right ones *)
-         end
-     if revdb_denotes r v then want_commit r v t a
-    else match (norm_base r (fst v), snd v) with
-         | (BBranch b, []) =>                         (* dirty branch: `db/branch` is the branch's working set *)
-           match branch_working r b with
-           | Some w => match assoc t (d_schema w) with
-                       | Some cols => ans_eqb a (ARows cols (rows_of t (d_data w)))
-                       | None => is_error a
-                       end
-           | None => is_error a
-           end
-         | _ => match a with ARows _ _ | AHist _ _ => want_commit r v t a | _ => true end   (* refusing is fine; rows must be the right ones *)
-         end
-     if revdb_denotes r v then want_commit r v t a
-    else match (norm_base r (fst v), snd v) with
-         | (BBranch b, []) =>                         (* dirty branch: `db/branch` is the branch's working set *)
-           match branch_working r b with
-           | Some w => match assoc t (d_schema w) with
-                       | Some cols => ans_eqb a (ARows cols (rows_of t (d_data w)))
-                       | None => is_error a
-                       end
-           | None => is_error a
-           end
-         | _ => match a with ARows _ _ | AHist _ _ => want_commit r v t a | _ => true end   (* refusing is fine; rows must be the right ones *)
-         end
-     if revdb_denotes r v then want_commit r v t a
-    else match (norm_base r (fst v), snd v) with
-         | (BBranch b, []) =>                         (* dirty branch: `db/branch` is the branch's working set *)
-           match branch_working r b with
-           | Some w => match assoc t (d_schema w) with
-                       | Some cols => ans_eqb a (ARows cols (rows_of t (d_data w)))
-                       | None => is_error a
-                       end
-           | None => is_error a
-           end
-         | _ => match a with ARows _ _ | AHist _ _ => want_commit r v t a | _ => true end   (* refusing is fine; rows must be the right ones *)
-         end
-     if revdb_denotes r v then want_commit r v t a
-    else match (norm_base r (fst v), snd v) with
-         | (BBranch b, []) =>                         (* dirty branch: `db/branch` is the branch's working set *)
-           match branch_working r b with
-           | Some w => match assoc t (d_schema w) with
-                       | Some cols => ans_eqb a (ARows cols (rows_of t (d_data w)))
-                       | None => is_error a
-                       end
-           | None => is_error a
-           end
-         | _ => match a with ARows _ _ | AHist _ _ => want_commit r v t a | _ => true end   (* refusing is fine; rows must be the right ones *)
-         end
-     if revdb_denotes r v then want_commit r v t a
-    else match (norm_base r (fst v), snd v) with
-         | (BBranch b, []) =>                         (* dirty branch: `db/branch` is the branch's working set *)
-           match branch_working r b with
-           | Some w => match assoc t (d_schema w) with
-                       | Some cols => ans_eqb a (ARows cols (rows_of t (d_data w)))
-                       | None => is_error a
-                       end
-           | None => is_error a
-           end
-         | _ => match a with ARows _ _ | AHist _ _ => want_commit r v t a | _ => true end   (* refusing is fine; rows must be the right ones *)
-         end
-     if revdb_denotes r v then want_commit r v t a
-    else match (norm_base r (fst v), snd v) with
-         | (BBranch b, []) =>                         (* dirty branch: `db/branch` is the branch's working set *)
-           match branch_working r b with
-           | Some w => match assoc t (d_schema w) with
-                       | Some cols => ans_eqb a (ARows cols (rows_of t (d_data w)))
-                       | None => is_error a
-                       end
-           | None => is_error a
-           end
-         | _ => match a with ARows _ _ | AHist _ _ => want_commit r v t a | _ => true end   (* refusing is fine; rows must be the right ones *)
-         end
-     if revdb_denotes r v then want_commit r v t a
-    else match (norm_base r (fst v), snd v) with
-         | (BBranch b, []) =>                         (* dirty branch: `db/branch` is the branch's working set *)
-           match branch_working r b with
-           | Some w => match assoc t (d_schema w) with
-                       | Some cols => ans_eqb a (ARows cols (rows_of t (d_data w)))
-                       | None => is_error a
-                       end
-           | None => is_error a
-           end
-         | _ => match a with ARows _ _ | AHist _ _ => want_commit r v t a | _ => true end   (* refusing is fine; rows must be the right ones *)
-         end
-     if revdb_denotes r v then want_commit r v t a
-    else match (norm_base r (fst v), snd v) with
-         | (BBranch b, []) =>                         (* dirty branch: `db/branch` is the branch's working set *)
-           match branch_working r b with
-           | Some w => match assoc t (d_schema w) with
-                       | Some cols => ans_eqb a (ARows cols (rows_of t (d_data w)))
-                       | None => is_error a
-                       end
-           | None => is_error a
-           end
-         | _ => match a with ARows _ _ | AHist _ _ => want_commit r v t a | _ => true end   (* refusing is fine; rows must be the right ones *)
-         end
-     if revdb_denotes r v then want_commit r v t a
-    else match (norm_base r (fst v), snd v) with
-         | (BBranch b, []) =>                         (* dirty branch: `db/branch` is the branch's working set *)
-           match branch_working r b with
-           | Some w => match assoc t (d_schema w) with
-                       | Some cols => ans_eqb a (ARows cols (rows_of t (d_data w)))
-                       | None => is_error a
-                       end
-           | None => is_error a
-           end
-         | _ => match a with ARows _ _ | AHist _ _ => want_commit r v t a | _ => true end   (* refusing is fine; rows must be the right ones *)
-         end
-     if revdb_denotes r v then want_commit r v t a
-    else match (norm_base r (fst v), snd v) with
-         | (BBranch b, []) =>                         (* dirty branch: `db/branch` is the branch's working set *)
-           match branch_working r b with
-           | Some w => match assoc t (d_schema w) with
-                       | Some cols => ans_eqb a (ARows cols (rows_of t (d_data w)))
-                       | None => is_error a
-                       end
-           | None => is_error a
-           end
-         | _ => match a with ARows _ _ | AHist _ _ => want_commit r v t a | _ => true end   (* refusing is fine; rows must be the right ones *)
-         end
-     if revdb_denotes r v then want_commit r v t a
-    else match (norm_base r (fst v), snd v) with
-         | (BBranch b, []) =>                         (* dirty branch: `db/branch` is the branch's working set *)
-           match branch_working r b with
-           | Some w => match assoc t (d_schema w) with
-                       | Some cols => ans_eqb a (ARows cols (rows_of t (d_data w)))
-                       | None => is_error a
-                       end
-           | None => is_error a
-           end
-         | _ => match a with ARows _ _ | AHist _ _ => want_commit r v t a | _ => true end   (* refusing is fine; rows must be the right ones *)
-         end
-     if revdb_denotes r v then want_commit r v t a
-    else match (norm_base r (fst v), snd v) with
-         | (BBranch b, []) =>                         (* dirty branch: `db/branch` is the branch's working set *)
-           match branch_working r b with
-           | Some w => match assoc t (d_schema w) with
-                       | Some cols => ans_eqb a (ARows cols (rows_of t (d_data w)))
-                       | None => is_error a
-                       end
-           | None => is_error a
-           end
-         | _ => match a with ARows _ _ | AHist _ _ => want_commit r v t a | _ => true end   (* refusing is fine; rows must be the right ones *)
-         end
-     if revdb_denotes r v then want_commit r v t a
-    else match (norm_base r (fst v), snd v) with
-         | (BBranch b, []) =>                         (* dirty branch: `db/branch` is the branch's working set *)
-           match branch_working r b with
-           | Some w => match assoc t (d_schema w) with
-                       | Some cols => ans_eqb a (ARows cols (rows_of t (d_data w)))
-                       | None => is_error a
-                       end
-           | None => is_error a
-           end
-         | _ => match a with ARows _ _ | AHist _ _ => want_commit r v t a | _ => true end   (* refusing is fine; rows must be the right ones *)
-         end
-     if revdb_denotes r v then want_commit r v t a
-    else match (norm_base r (fst v), snd v) with
-         | (BBranch b, []) =>                         (* dirty branch: `db/branch` is the branch's working set *)
-           match branch_working r b with
-           | Some w => match assoc t (d_schema w) with
-                       | Some cols => ans_eqb a (ARows cols (rows_of t (d_data w)))
-                       | None => is_error a
-                       end
-           | None => is_error a
-           end
-         | _ => match a with ARows _ _ | AHist _ _ => want_commit r v t a | _ => true end   (* refusing is fine; rows must be the right ones *)
-         end
-     if revdb_denotes r v then want_commit r v t a
-    else match (norm_base r (fst v), snd v) with
-         | (BBranch b, []) =>                         (* dirty branch: `db/branch` is the branch's working set *)
-           match branch_working r b with
-           | Some w => match assoc t (d_schema w) with
-                       | Some cols => ans_eqb a (ARows cols (rows_of t (d_data w)))
-                       | None => is_error a
-                       end
-           | None => is_error a
-           end
-         | _ => match a with ARows _ _ | AHist _ _ => want_commit r v t a | _ => true end   (* refusing is fine; rows must be the right ones *)
-         end
-     if revdb_denotes r v then want_commit r v t a
-    else match (norm_base r (fst v), snd v) with
-         | (BBranch b, []) =>                         (* dirty branch: `db/branch` is the branch's working set *)
-           match branch_working r b with
-           | Some w => match assoc t (d_schema w) with
-                       | Some cols => ans_eqb a (ARows cols (rows_of t (d_data w)))
-                       | None => is_error a
-                       end
-           | None => is_error a
-           end
-         | _ => match a with ARows _ _ | AHist _ _ => want_commit r v t a | _ => true end   (* refusing is fine; rows must be the right ones *)
-         end
-     if revdb_denotes r v then want_commit r v t a
-    else match (norm_base r (fst v), snd v) with
-         | (BBranch b, []) =>                         (* dirty branch: `db/branch` is the branch's working set *)
-           match branch_working r b with
-           | Some w => match assoc t (d_schema w) with
-                       | Some cols => ans_eqb a (ARows cols (rows_of t (d_data w)))
-                       | None => is_error a
-                       end
-           | None => is_error a
-           end
-         | _ => match a with ARows _ _ | AHist _ _ => want_commit r v t a | _ => true end   (* refusing is fine; rows must be the right ones *)
-         end
-     if revdb_denotes r v then want_commit r v t a
-    else match (norm_base r (fst v), snd v) with
-         | (BBranch b, []) =>                         (* dirty branch: `db/branch` is the branch's working set *)
-           match branch_working r b with
-           | Some w => match assoc t (d_schema w) with
-                       | Some cols => ans_eqb a (ARows cols (rows_of t (d_data w)))
-                       | None => is_error a
-                       end
-           | None => is_error a
-           end
-         | _ => match a with ARows _ _ | AHist _ _ => want_commit r v t a | _ => true end   (* refusing is fine; rows must be the right ones *)
-         end
-     if revdb_denotes r v then want_commit r v t a
-    else match (norm_base r (fst v), snd v) with
-         | (BBranch b, []) =>                         (* dirty branch: `db/branch` is the branch's working set *)
-           match branch_working r b with
-           | Some w => match assoc t (d_schema w) with
-                       | Some cols => ans_eqb a (ARows cols (rows_of t (d_data w)))
-                       | None => is_error a
-                       end
-           | None => is_error a
-           end
-         | _ => match a with ARows _ _ | AHist _ _ => want_commit r v t a | _ => true end   (* refusing is fine; rows must be the right ones *)
-         end
-     if revdb_denotes r v then want_commit r v t a
-    else match (norm_base r (fst v), snd v) with
-         | (BBranch b, []) =>                         (* dirty branch: `db/branch` is the branch's working set *)
-           match branch_working r b with
-           | Some w => match assoc t (d_schema w) with
-                       | Some cols => ans_eqb a (ARows cols (rows_of t (d_data w)))
-                       | None => is_error a
-                       end
-           | None => is_error a
-           end
-         | _ => match a with ARows _ _ | AHist _ _ => want_commit r v t a | _ => true end   (* refusing is fine; rows must be the right ones *)
-         end
-|    if revdb_denotes r v then want_commit r v t a
-    else match (norm_base r (fst v), snd v) with
-         | (BBranch b, []) =>                         (* dirty branch: `db/branch` is the branch's working set *)
-           match branch_working r b with
-           | Some w => match assoc t (d_schema w) with
-                       | Some cols => ans_eqb a (ARows cols (rows_of t (d_data w)))
-                       | None => is_error a
-                       end
-           | None => is_error a
-           end
-         | _ => match a with ARows _ _ | AHist _ _ => want_commit r v t a | _ => true end   (* refusing is fine; rows must be the right ones *)
-         end
-     if revdb_denotes r v then want_commit r v t a
-    else match (norm_base r (fst v), snd v) with
-         | (BBranch b, []) =>                         (* dirty branch: `db/branch` is the branch's working set *)
-           match branch_working r b with
-           | Some w => match assoc t (d_schema w) with
-                       | Some cols => ans_eqb a (ARows cols (rows_of t (d_data w)))
-                       | None => is_error a
-                       end
-           | None => is_error a
-           end
-         | _ => match a with ARows _ _ | AHist _ _ => want_commit r v t a | _ => true end   (* refusing is fine; rows must be the right ones *)
-         end
-S    if revdb_denotes r v then want_commit r v t a
-    else match (norm_base r (fst v), snd v) with
-         | (BBranch b, []) =>                         (* dirty branch: `db/branch` is the branch's working set *)
-           match branch_working r b with
-           | Some w => match assoc t (d_schema w) with
-                       | Some cols => ans_eqb a (ARows cols (rows_of t (d_data w)))
-                       | None => is_error a
-                       end
-           | None => is_error a
-           end
-         | _ => match a with ARows _ _ | AHist _ _ => want_commit r v t a | _ => true end   (* refusing is fine; rows must be the right ones *)
-         end
-o    if revdb_denotes r v then want_commit r v t a
-    else match (norm_base r (fst v), snd v) with
-         | (BBranch b, []) =>                         (* dirty branch: `db/branch` is the branch's working set *)
-           match branch_working r b with
-           | Some w => match assoc t (d_schema w) with
-                       | Some cols => ans_eqb a (ARows cols (rows_of t (d_data w)))
-                       | None => is_error a
-                       end
-           | None => is_error a
-           end
-         | _ => match a with ARows _ _ | AHist _ _ => want_commit r v t a | _ => true end   (* refusing is fine; rows must be the right ones *)
-         end
-m    if revdb_denotes r v then want_commit r v t a
-    else match (norm_base r (fst v), snd v) with
-         | (BBranch b, []) =>                         (* dirty branch: `db/branch` is the branch's working set *)
-           match branch_working r b with
-           | Some w => match assoc t (d_schema w) with
-                       | Some cols => ans_eqb a (ARows cols (rows_of t (d_data w)))
-                       | None => is_error a
-                       end
-           | None => is_error a
-           end
-         | _ => match a with ARows _ _ | AHist _ _ => want_commit r v t a | _ => true end   (* refusing is fine; rows must be the right ones *)
-         end
-e    if revdb_denotes r v then want_commit r v t a
-    else match (norm_base r (fst v), snd v) with
-         | (BBranch b, []) =>                         (* dirty branch: `db/branch` is the branch's working set *)
-           match branch_working r b with
-           | Some w => match assoc t (d_schema w) with
-                       | Some cols => ans_eqb a (ARows cols (rows_of t (d_data w)))
-                       | None => is_error a
-                       end
-           | None => is_error a
-           end
-         | _ => match a with ARows _ _ | AHist _ _ => want_commit r v t a | _ => true end   (* refusing is fine; rows must be the right ones *)
-         end
-     if revdb_denotes r v then want_commit r v t a
-    else match (norm_base r (fst v), snd v) with
-         | (BBranch b, []) =>                         (* dirty branch: `db/branch` is the branch's working set *)
-           match branch_working r b with
-           | Some w => match assoc t (d_schema w) with
-                       | Some cols => ans_eqb a (ARows cols (rows_of t (d_data w)))
-                       | None => is_error a
-                       end
-           | None => is_error a
-           end
-         | _ => match a with ARows _ _ | AHist _ _ => want_commit r v t a | _ => true end   (* refusing is fine; rows must be the right ones *)
-         end
-c    if revdb_denotes r v then want_commit r v t a
-    else match (norm_base r (fst v), snd v) with
-         | (BBranch b, []) =>                         (* dirty branch: `db/branch` is the branch's working set *)
-           match branch_working r b with
-           | Some w => match assoc t (d_schema w) with
-                       | Some cols => ans_eqb a (ARows cols (rows_of t (d_data w)))
-                       | None => is_error a
-                       end
-           | None => is_error a
-           end
-         | _ => match a with ARows _ _ | AHist _ _ => want_commit r v t a | _ => true end   (* refusing is fine; rows must be the right ones *)
-         end
-o    if revdb_denotes r v then want_commit r v t a
-    else match (norm_base r (fst v), snd v) with
-         | (BBranch b, []) =>                         (* dirty branch: `db/branch` is the branch's working set *)
-           match branch_working r b with
-           | Some w => match assoc t (d_schema w) with
-                       | Some cols => ans_eqb a (ARows cols (rows_of t (d_data w)))
-                       | None => is_error a
-                       end
-           | None => is_error a
-           end
-         | _ => match a with ARows _ _ | AHist _ _ => want_commit r v t a | _ => true end   (* refusing is fine; rows must be the right ones *)
-         end
-l    if revdb_denotes r v then want_commit r v t a
-    else match (norm_base r (fst v), snd v) with
-         | (BBranch b, []) =>                         (* dirty branch: `db/branch` is the branch's working set *)
-           match branch_working r b with
-           | Some w => match assoc t (d_schema w) with
-                       | Some cols => ans_eqb a (ARows cols (rows_of t (d_data w)))
-                       | None => is_error a
-                       end
-           | None => is_error a
-           end
-         | _ => match a with ARows _ _ | AHist _ _ => want_commit r v t a | _ => true end   (* refusing is fine; rows must be the right ones *)
-         end
-s    if revdb_denotes r v then want_commit r v t a
-    else match (norm_base r (fst v), snd v) with
-         | (BBranch b, []) =>                         (* dirty branch: `db/branch` is the branch's working set *)
-           match branch_working r b with
-           | Some w => match assoc t (d_schema w) with
-                       | Some cols => ans_eqb a (ARows cols (rows_of t (d_data w)))
-                       | None => is_error a
-                       end
-           | None => is_error a
-           end
-         | _ => match a with ARows _ _ | AHist _ _ => want_commit r v t a | _ => true end   (* refusing is fine; rows must be the right ones *)
-         end
-     if revdb_denotes r v then want_commit r v t a
-    else match (norm_base r (fst v), snd v) with
-         | (BBranch b, []) =>                         (* dirty branch: `db/branch` is the branch's working set *)
-           match branch_working r b with
-           | Some w => match assoc t (d_schema w) with
-                       | Some cols => ans_eqb a (ARows cols (rows_of t (d_data w)))
-                       | None => is_error a
-                       end
-           | None => is_error a
-           end
-         | _ => match a with ARows _ _ | AHist _ _ => want_commit r v t a | _ => true end   (* refusing is fine; rows must be the right ones *)
-         end
-=    if revdb_denotes r v then want_commit r v t a
-    else match (norm_base r (fst v), snd v) with
-         | (BBranch b, []) =>                         (* dirty branch: `db/branch` is the branch's working set *)
-           match branch_working r b with
-           | Some w => match assoc t (d_schema w) with
-                       | Some cols => ans_eqb a (ARows cols (rows_of t (d_data w)))
-                       | None => is_error a
-                       end
-           | None => is_error a
-           end
-         | _ => match a with ARows _ _ | AHist _ _ => want_commit r v t a | _ => true end   (* refusing is fine; rows must be the right ones *)
-         end
->    if revdb_denotes r v then want_commit r v t a
-    else match (norm_base r (fst v), snd v) with
-         | (BBranch b, []) =>                         (* dirty branch: `db/branch` is the branch's working set *)
-           match branch_working r b with
-           | Some w => match assoc t (d_schema w) with
-                       | Some cols => ans_eqb a (ARows cols (rows_of t (d_data w)))
-                       | None => is_error a
-                       end
-           | None => is_error a
-           end
-         | _ => match a with ARows _ _ | AHist _ _ => want_commit r v t a | _ => true end   (* refusing is fine; rows must be the right ones *)
-         end
-     if revdb_denotes r v then want_commit r v t a
-    else match (norm_base r (fst v), snd v) with
-         | (BBranch b, []) =>                         (* dirty branch: `db/branch` is the branch's working set *)
-           match branch_working r b with
-           | Some w => match assoc t (d_schema w) with
-                       | Some cols => ans_eqb a (ARows cols (rows_of t (d_data w)))
-                       | None => is_error a
-                       end
-           | None => is_error a
-           end
-         | _ => match a with ARows _ _ | AHist _ _ => want_commit r v t a | _ => true end   (* refusing is fine; rows must be the right ones *)
-         end
-a    if revdb_denotes r v then want_commit r v t a
-    else match (norm_base r (fst v), snd v) with
-         | (BBranch b, []) =>                         (* dirty branch: `db/branch` is the branch's working set *)
-           match branch_working r b with
-           | Some w => match assoc t (d_schema w) with
-                       | Some cols => ans_eqb a (ARows cols (rows_of t (d_data w)))
-                       | None => is_error a
-                       end
-           | None => is_error a
-           end
-         | _ => match a with ARows _ _ | AHist _ _ => want_commit r v t a | _ => true end   (* refusing is fine; rows must be the right ones *)
-         end
-n    if revdb_denotes r v then want_commit r v t a
-    else match (norm_base r (fst v), snd v) with
-         | (BBranch b, []) =>                         (* dirty branch: `db/branch` is the branch's working set *)
-           match branch_working r b with
-           | Some w => match assoc t (d_schema w) with
-                       | Some cols => ans_eqb a (ARows cols (rows_of t (d_data w)))
-                       | None => is_error a
-                       end
-           | None => is_error a
-           end
-         | _ => match a with ARows _ _ | AHist _ _ => want_commit r v t a | _ => true end   (* refusing is fine; rows must be the right ones *)
-         end
-s    if revdb_denotes r v then want_commit r v t a
-    else match (norm_base r (fst v), snd v) with
-         | (BBranch b, []) =>                         (* dirty branch: `db/branch` is the branch's working set *)
-           match branch_working r b with
-           | Some w => match assoc t (d_schema w) with
-                       | Some cols => ans_eqb a (ARows cols (rows_of t (d_data w)))
-                       | None => is_error a
-                       end
-           | None => is_error a
-           end
-         | _ => match a with ARows _ _ | AHist _ _ => want_commit r v t a | _ => true end   (* refusing is fine; rows must be the right ones *)
-         end
-_    if revdb_denotes r v then want_commit r v t a
-    else match (norm_base r (fst v), snd v) with
-         | (BBranch b, []) =>                         (* dirty branch: `db/branch` is the branch's working set *)
-           match branch_working r b with
-           | Some w => match assoc t (d_schema w) with
-                       | Some cols => ans_eqb a (ARows cols (rows_of t (d_data w)))
-                       | None => is_error a
-                       end
-           | None => is_error a
-           end
-         | _ => match a with ARows _ _ | AHist _ _ => want_commit r v t a | _ => true end   (* refusing is fine; rows must be the right ones *)
-         end
-e    if revdb_denotes r v then want_commit r v t a
-    else match (norm_base r (fst v), snd v) with
-         | (BBranch b, []) =>                         (* dirty branch: `db/branch` is the branch's working set *)
-           match branch_working r b with
-           | Some w => match assoc t (d_schema w) with
-                       | Some cols => ans_eqb a (ARows cols (rows_of t (d_data w)))
-                       | None => is_error a
-                       end
-           | None => is_error a
-           end
-         | _ => match a with ARows _ _ | AHist _ _ => want_commit r v t a | _ => true end   (* refusing is fine; rows must be the right ones *)
-         end
-q    if revdb_denotes r v then want_commit r v t a
-    else match (norm_base r (fst v), snd v) with
-         | (BBranch b, []) =>                         (* dirty branch: `db/branch` is the branch's working set *)
-           match branch_working r b with
-           | Some w => match assoc t (d_schema w) with
-                       | Some cols => ans_eqb a (ARows cols (rows_of t (d_data w)))
-                       | None => is_error a
-                       end
-           | None => is_error a
-           end
-         | _ => match a with ARows _ _ | AHist _ _ => want_commit r v t a | _ => true end   (* refusing is fine; rows must be the right ones *)
-         end
-b    if revdb_denotes r v then want_commit r v t a
-    else match (norm_base r (fst v), snd v) with
-         | (BBranch b, []) =>                         (* dirty branch: `db/branch` is the branch's working set *)
-           match branch_working r b with
-           | Some w => match assoc t (d_schema w) with
-                       | Some cols => ans_eqb a (ARows cols (rows_of t (d_data w)))
-                       | None => is_error a
-                       end
-           | None => is_error a
-           end
-         | _ => match a with ARows _ _ | AHist _ _ => want_commit r v t a | _ => true end   (* refusing is fine; rows must be the right ones *)
-         end
-     if revdb_denotes r v then want_commit r v t a
-    else match (norm_base r (fst v), snd v) with
-         | (BBranch b, []) =>                         (* dirty branch: `db/branch` is the branch's working set *)
-           match branch_working r b with
-           | Some w => match assoc t (d_schema w) with
-                       | Some cols => ans_eqb a (ARows cols (rows_of t (d_data w)))
-                       | None => is_error a
-                       end
-           | None => is_error a
-           end
-         | _ => match a with ARows _ _ | AHist _ _ => want_commit r v t a | _ => true end   (* refusing is fine; rows must be the right ones *)
-         end
-a    if revdb_denotes r v then want_commit r v t a
-    else match (norm_base r (fst v), snd v) with
-         | (BBranch b, []) =>                         (* dirty branch: `db/branch` is the branch's working set *)
-           match branch_working r b with
-           | Some w => match assoc t (d_schema w) with
-                       | Some cols => ans_eqb a (ARows cols (rows_of t (d_data w)))
-                       | None => is_error a
-                       end
-           | None => is_error a
-           end
-         | _ => match a with ARows _ _ | AHist _ _ => want_commit r v t a | _ => true end   (* refusing is fine; rows must be the right ones *)
-         end
-     if revdb_denotes r v then want_commit r v t a
-    else match (norm_base r (fst v), snd v) with
-         | (BBranch b, []) =>                         (* dirty branch: `db/branch` is the branch's working set *)
-           match branch_working r b with
-           | Some w => match assoc t (d_schema w) with
-                       | Some cols => ans_eqb a (ARows cols (rows_of t (d_data w)))
-                       | None => is_error a
-                       end
-           | None => is_error a
-           end
-         | _ => match a with ARows _ _ | AHist _ _ => want_commit r v t a | _ => true end   (* refusing is fine; rows must be the right ones *)
-         end
-(    if revdb_denotes r v then want_commit r v t a
-    else match (norm_base r (fst v), snd v) with
-         | (BBranch b, []) =>                         (* dirty branch: `db/branch` is the branch's working set *)
-           match branch_working r b with
-           | Some w => match assoc t (d_schema w) with
-                       | Some cols => ans_eqb a (ARows cols (rows_of t (d_data w)))
-                       | None => is_error a
-                       end
-           | None => is_error a
-           end
-         | _ => match a with ARows _ _ | AHist _ _ => want_commit r v t a | _ => true end   (* refusing is fine; rows must be the right ones *)
-         end
-A    if revdb_denotes r v then want_commit r v t a
-    else match (norm_base r (fst v), snd v) with
-         | (BBranch b, []) =>                         (* dirty branch: `db/branch` is the branch's working set *)
-           match branch_working r b with
-           | Some w => match assoc t (d_schema w) with
-                       | Some cols => ans_eqb a (ARows cols (rows_of t (d_data w)))
-                       | None => is_error a
-                       end
-           | None => is_error a
-           end
-         | _ => match a with ARows _ _ | AHist _ _ => want_commit r v t a | _ => true end   (* refusing is fine; rows must be the right ones *)
-         end
-R    if revdb_denotes r v then want_commit r v t a
-    else match (norm_base r (fst v), snd v) with
-         | (BBranch b, []) =>                         (* dirty branch: `db/branch` is the branch's working set *)
-           match branch_working r b with
-           | Some w => match assoc t (d_schema w) with
-                       | Some cols => ans_eqb a (ARows cols (rows_of t (d_data w)))
-                       | None => is_error a
-                       end
-           | None => is_error a
-           end
-         | _ => match a with ARows _ _ | AHist _ _ => want_commit r v t a | _ => true end   (* refusing is fine; rows must be the right ones *)
-         end
-o    if revdb_denotes r v then want_commit r v t a
-    else match (norm_base r (fst v), snd v) with
-         | (BBranch b, []) =>                         (* dirty branch: `db/branch` is the branch's working set *)
-           match branch_working r b with
-           | Some w => match assoc t (d_schema w) with
-                       | Some cols => ans_eqb a (ARows cols (rows_of t (d_data w)))
-                       | None => is_error a
-                       end
-           | None => is_error a
-           end
-         | _ => match a with ARows _ _ | AHist _ _ => want_commit r v t a | _ => true end   (* refusing is fine; rows must be the right ones *)
-         end
-w    if revdb_denotes r v then want_commit r v t a
-    else match (norm_base r (fst v), snd v) with
-         | (BBranch b, []) =>                         (* dirty branch: `db/branch` is the branch's working set *)
-           match branch_working r b with
-           | Some w => match assoc t (d_schema w) with
-                       | Some cols => ans_eqb a (ARows cols (rows_of t (d_data w)))
-                       | None => is_error a
-                       end
-           | None => is_error a
-           end
-         | _ => match a with ARows _ _ | AHist _ _ => want_commit r v t a | _ => true end   (* refusing is fine; rows must be the right ones *)
-         end
-s    if revdb_denotes r v then want_commit r v t a
-    else match (norm_base r (fst v), snd v) with
-         | (BBranch b, []) =>                         (* dirty branch: `db/branch` is the branch's working set *)
-           match branch_working r b with
-           | Some w => match assoc t (d_schema w) with
-                       | Some cols => ans_eqb a (ARows cols (rows_of t (d_data w)))
-                       | None => is_error a
-                       end
-           | None => is_error a
-           end
-         | _ => match a with ARows _ _ | AHist _ _ => want_commit r v t a | _ => true end   (* refusing is fine; rows must be the right ones *)
-         end
-     if revdb_denotes r v then want_commit r v t a
-    else match (norm_base r (fst v), snd v) with
-         | (BBranch b, []) =>                         (* dirty branch: `db/branch` is the branch's working set *)
-           match branch_working r b with
-           | Some w => match assoc t (d_schema w) with
-                       | Some cols => ans_eqb a (ARows cols (rows_of t (d_data w)))
-                       | None => is_error a
-                       end
-           | None => is_error a
-           end
-         | _ => match a with ARows _ _ | AHist _ _ => want_commit r v t a | _ => true end   (* refusing is fine; rows must be the right ones *)
-         end
-c    if revdb_denotes r v then want_commit r v t a
-    else match (norm_base r (fst v), snd v) with
-         | (BBranch b, []) =>                         (* dirty branch: `db/branch` is the branch's working set *)
-           match branch_working r b with
-           | Some w => match assoc t (d_schema w) with
-                       | Some cols => ans_eqb a (ARows cols (rows_of t (d_data w)))
-                       | None => is_error a
-                       end
-           | None => is_error a
-           end
-         | _ => match a with ARows _ _ | AHist _ _ => want_commit r v t a | _ => true end   (* refusing is fine; rows must be the right ones *)
-         end
-o    if revdb_denotes r v then want_commit r v t a
-    else match (norm_base r (fst v), snd v) with
-         | (BBranch b, []) =>                         (* dirty branch: `db/branch` is the branch's working set *)
-           match branch_working r b with
-           | Some w => match assoc t (d_schema w) with
-                       | Some cols => ans_eqb a (ARows cols (rows_of t (d_data w)))
-                       | None => is_error a
-                       end
-           | None => is_error a
-           end
-         | _ => match a with ARows _ _ | AHist _ _ => want_commit r v t a | _ => true end   (* refusing is fine; rows must be the right ones *)
-         end
-l    if revdb_denotes r v then want_commit r v t a
-    else match (norm_base r (fst v), snd v) with
-         | (BBranch b, []) =>                         (* dirty branch: `db/branch` is the branch's working set *)
-           match branch_working r b with
-           | Some w => match assoc t (d_schema w) with
-                       | Some cols => ans_eqb a (ARows cols (rows_of t (d_data w)))
-                       | None => is_error a
-                       end
-           | None => is_error a
-           end
-         | _ => match a with ARows _ _ | AHist _ _ => want_commit r v t a | _ => true end   (* refusing is fine; rows must be the right ones *)
-         end
-s    if revdb_denotes r v then want_commit r v t a
-    else match (norm_base r (fst v), snd v) with
-         | (BBranch b, []) =>                         (* dirty branch: `db/branch` is the branch's working set *)
-           match branch_working r b with
-           | Some w => match assoc t (d_schema w) with
-                       | Some cols => ans_eqb a (ARows cols (rows_of t (d_data w)))
-                       | None => is_error a
-                       end
-           | None => is_error a
-           end
-         | _ => match a with ARows _ _ | AHist _ _ => want_commit r v t a | _ => true end   (* refusing is fine; rows must be the right ones *)
-         end
-     if revdb_denotes r v then want_commit r v t a
-    else match (norm_base r (fst v), snd v) with
-         | (BBranch b, []) =>                         (* dirty branch: `db/branch` is the branch's working set *)
-           match branch_working r b with
-           | Some w => match assoc t (d_schema w) with
-                       | Some cols => ans_eqb a (ARows cols (rows_of t (d_data w)))
-                       | None => is_error a
-                       end
-           | None => is_error a
-           end
-         | _ => match a with ARows _ _ | AHist _ _ => want_commit r v t a | _ => true end   (* refusing is fine; rows must be the right ones *)
-         end
-(    if revdb_denotes r v then want_commit r v t a
-    else match (norm_base r (fst v), snd v) with
-         | (BBranch b, []) =>                         (* dirty branch: `db/branch` is the branch's working set *)
-           match branch_working r b with
-           | Some w => match assoc t (d_schema w) with
-                       | Some cols => ans_eqb a (ARows cols (rows_of t (d_data w)))
-                       | None => is_error a
-                       end
-           | None => is_error a
-           end
-         | _ => match a with ARows _ _ | AHist _ _ => want_commit r v t a | _ => true end   (* refusing is fine; rows must be the right ones *)
-         end
-r    if revdb_denotes r v then want_commit r v t a
-    else match (norm_base r (fst v), snd v) with
-         | (BBranch b, []) =>                         (* dirty branch: `db/branch` is the branch's working set *)
-           match branch_working r b with
-           | Some w => match assoc t (d_schema w) with
-                       | Some cols => ans_eqb a (ARows cols (rows_of t (d_data w)))
-                       | None => is_error a
-                       end
-           | None => is_error a
-           end
-         | _ => match a with ARows _ _ | AHist _ _ => want_commit r v t a | _ => true end   (* refusing is fine; rows must be the right ones *)
-         end
-o    if revdb_denotes r v then want_commit r v t a
-    else match (norm_base r (fst v), snd v) with
-         | (BBranch b, []) =>                         (* dirty branch: `db/branch` is the branch's working set *)
-           match branch_working r b with
-           | Some w => match assoc t (d_schema w) with
-                       | Some cols => ans_eqb a (ARows cols (rows_of t (d_data w)))
-                       | None => is_error a
-                       end
-           | None => is_error a
-           end
-         | _ => match a with ARows _ _ | AHist _ _ => want_commit r v t a | _ => true end   (* refusing is fine; rows must be the right ones *)
-         end
-w    if revdb_denotes r v then want_commit r v t a
-    else match (norm_base r (fst v), snd v) with
-         | (BBranch b, []) =>                         (* dirty branch: `db/branch` is the branch's working set *)
-           match branch_working r b with
-           | Some w => match assoc t (d_schema w) with
-                       | Some cols => ans_eqb a (ARows cols (rows_of t (d_data w)))
-                       | None => is_error a
-                       end
-           | None => is_error a
-           end
-         | _ => match a with ARows _ _ | AHist _ _ => want_commit r v t a | _ => true end   (* refusing is fine; rows must be the right ones *)
-         end
-s    if revdb_denotes r v then want_commit r v t a
-    else match (norm_base r (fst v), snd v) with
-         | (BBranch b, []) =>                         (* dirty branch: `db/branch` is the branch's working set *)
-           match branch_working r b with
-           | Some w => match assoc t (d_schema w) with
-                       | Some cols => ans_eqb a (ARows cols (rows_of t (d_data w)))
-                       | None => is_error a
-                       end
-           | None => is_error a
-           end
-         | _ => match a with ARows _ _ | AHist _ _ => want_commit r v t a | _ => true end   (* refusing is fine; rows must be the right ones *)
-         end
-_    if revdb_denotes r v then want_commit r v t a
-    else match (norm_base r (fst v), snd v) with
-         | (BBranch b, []) =>                         (* dirty branch: `db/branch` is the branch's working set *)
-           match branch_working r b with
-           | Some w => match assoc t (d_schema w) with
-                       | Some cols => ans_eqb a (ARows cols (rows_of t (d_data w)))
-                       | None => is_error a
-                       end
-           | None => is_error a
-           end
-         | _ => match a with ARows _ _ | AHist _ _ => want_commit r v t a | _ => true end   (* refusing is fine; rows must be the right ones *)
-         end
-o    if revdb_denotes r v then want_commit r v t a
-    else match (norm_base r (fst v), snd v) with
-         | (BBranch b, []) =>                         (* dirty branch: `db/branch` is the branch's working set *)
-           match branch_working r b with
-           | Some w => match assoc t (d_schema w) with
-                       | Some cols => ans_eqb a (ARows cols (rows_of t (d_data w)))
-                       | None => is_error a
-                       end
-           | None => is_error a
-           end
-         | _ => match a with ARows _ _ | AHist _ _ => want_commit r v t a | _ => true end   (* refusing is fine; rows must be the right ones *)
-         end
-f    if revdb_denotes r v then want_commit r v t a
-    else match (norm_base r (fst v), snd v) with
-         | (BBranch b, []) =>                         (* dirty branch: `db/branch` is the branch's working set *)
-           match branch_working r b with
-           | Some w => match assoc t (d_schema w) with
-                       | Some cols => ans_eqb a (ARows cols (rows_of t (d_data w)))
-                       | None => is_error a
-                       end
-           | None => is_error a
-           end
-         | _ => match a with ARows _ _ | AHist _ _ => want_commit r v t a | _ => true end   (* refusing is fine; rows must be the right ones *)
-         end
-     if revdb_denotes r v then want_commit r v t a
-    else match (norm_base r (fst v), snd v) with
-         | (BBranch b, []) =>                         (* dirty branch: `db/branch` is the branch's working set *)
-           match branch_working r b with
-           | Some w => match assoc t (d_schema w) with
-                       | Some cols => ans_eqb a (ARows cols (rows_of t (d_data w)))
-                       | None => is_error a
-                       end
-           | None => is_error a
-           end
-         | _ => match a with ARows _ _ | AHist _ _ => want_commit r v t a | _ => true end   (* refusing is fine; rows must be the right ones *)
-         end
-t    if revdb_denotes r v then want_commit r v t a
-    else match (norm_base r (fst v), snd v) with
-         | (BBranch b, []) =>                         (* dirty branch: `db/branch` is the branch's working set *)
-           match branch_working r b with
-           | Some w => match assoc t (d_schema w) with
-                       | Some cols => ans_eqb a (ARows cols (rows_of t (d_data w)))
-                       | None => is_error a
-                       end
-           | None => is_error a
-           end
-         | _ => match a with ARows _ _ | AHist _ _ => want_commit r v t a | _ => true end   (* refusing is fine; rows must be the right ones *)
-         end
-     if revdb_denotes r v then want_commit r v t a
-    else match (norm_base r (fst v), snd v) with
-         | (BBranch b, []) =>                         (* dirty branch: `db/branch` is the branch's working set *)
-           match branch_working r b with
-           | Some w => match assoc t (d_schema w) with
-                       | Some cols => ans_eqb a (ARows cols (rows_of t (d_data w)))
-                       | None => is_error a
-                       end
-           | None => is_error a
-           end
-         | _ => match a with ARows _ _ | AHist _ _ => want_commit r v t a | _ => true end   (* refusing is fine; rows must be the right ones *)
-         end
-(    if revdb_denotes r v then want_commit r v t a
-    else match (norm_base r (fst v), snd v) with
-         | (BBranch b, []) =>                         (* dirty branch: `db/branch` is the branch's working set *)
-           match branch_working r b with
-           | Some w => match assoc t (d_schema w) with
-                       | Some cols => ans_eqb a (ARows cols (rows_of t (d_data w)))
-                       | None => is_error a
-                       end
-           | None => is_error a
-           end
-         | _ => match a with ARows _ _ | AHist _ _ => want_commit r v t a | _ => true end   (* refusing is fine; rows must be the right ones *)
-         end
-d    if revdb_denotes r v then want_commit r v t a
-    else match (norm_base r (fst v), snd v) with
-         | (BBranch b, []) =>                         (* dirty branch: `db/branch` is the branch's working set *)
-           match branch_working r b with
-           | Some w => match assoc t (d_schema w) with
-                       | Some cols => ans_eqb a (ARows cols (rows_of t (d_data w)))
-                       | None => is_error a
-                       end
-           | None => is_error a
-           end
-         | _ => match a with ARows _ _ | AHist _ _ => want_commit r v t a | _ => true end   (* refusing is fine; rows must be the right ones *)
-         end
-_    if revdb_denotes r v then want_commit r v t a
-    else match (norm_base r (fst v), snd v) with
-         | (BBranch b, []) =>                         (* dirty branch: `db/branch` is the branch's working set *)
-           match branch_working r b with
-           | Some w => match assoc t (d_schema w) with
-                       | Some cols => ans_eqb a (ARows cols (rows_of t (d_data w)))
-                       | None => is_error a
-                       end
-           | None => is_error a
-           end
-         | _ => match a with ARows _ _ | AHist _ _ => want_commit r v t a | _ => true end   (* refusing is fine; rows must be the right ones *)
-         end
-d    if revdb_denotes r v then want_commit r v t a
-    else match (norm_base r (fst v), snd v) with
-         | (BBranch b, []) =>                         (* dirty branch: `db/branch` is the branch's working set *)
-           match branch_working r b with
-           | Some w => match assoc t (d_schema w) with
-                       | Some cols => ans_eqb a (ARows cols (rows_of t (d_data w)))
-                       | None => is_error a
-                       end
-           | None => is_error a
-           end
-         | _ => match a with ARows _ _ | AHist _ _ => want_commit r v t a | _ => true end   (* refusing is fine; rows must be the right ones *)
-         end
-a    if revdb_denotes r v then want_commit r v t a
-    else match (norm_base r (fst v), snd v) with
-         | (BBranch b, []) =>                         (* dirty branch: `db/branch` is the branch's working set *)
-           match branch_working r b with
-           | Some w => match assoc t (d_schema w) with
-                       | Some cols => ans_eqb a (ARows cols (rows_of t (d_data w)))
-                       | None => is_error a
-                       end
-           | None => is_error a
-           end
-         | _ => match a with ARows _ _ | AHist _ _ => want_commit r v t a | _ => true end   (* refusing is fine; rows must be the right ones *)
-         end
-t    if revdb_denotes r v then want_commit r v t a
-    else match (norm_base r (fst v), snd v) with
-         | (BBranch b, []) =>                         (* dirty branch: `db/branch` is the branch's working set *)
-           match branch_working r b with
-           | Some w => match assoc t (d_schema w) with
-                       | Some cols => ans_eqb a (ARows cols (rows_of t (d_data w)))
-                       | None => is_error a
-                       end
-           | None => is_error a
-           end
-         | _ => match a with ARows _ _ | AHist _ _ => want_commit r v t a | _ => true end   (* refusing is fine; rows must be the right ones *)
-         end
-a    if revdb_denotes r v then want_commit r v t a
-    else match (norm_base r (fst v), snd v) with
-         | (BBranch b, []) =>                         (* dirty branch: `db/branch` is the branch's working set *)
-           match branch_working r b with
-           | Some w => match assoc t (d_schema w) with
-                       | Some cols => ans_eqb a (ARows cols (rows_of t (d_data w)))
-                       | None => is_error a
-                       end
-           | None => is_error a
-           end
-         | _ => match a with ARows _ _ | AHist _ _ => want_commit r v t a | _ => true end   (* refusing is fine; rows must be the right ones *)
-         end
-     if revdb_denotes r v then want_commit r v t a
-    else match (norm_base r (fst v), snd v) with
-         | (BBranch b, []) =>                         (* dirty branch: `db/branch` is the branch's working set *)
-           match branch_working r b with
-           | Some w => match assoc t (d_schema w) with
-                       | Some cols => ans_eqb a (ARows cols (rows_of t (d_data w)))
-                       | None => is_error a
-                       end
-           | None => is_error a
-           end
-         | _ => match a with ARows _ _ | AHist _ _ => want_commit r v t a | _ => true end   (* refusing is fine; rows must be the right ones *)
-         end
-(    if revdb_denotes r v then want_commit r v t a
-    else match (norm_base r (fst v), snd v) with
-         | (BBranch b, []) =>                         (* dirty branch: `db/branch` is the branch's working set *)
-           match branch_working r b with
-           | Some w => match assoc t (d_schema w) with
-                       | Some cols => ans_eqb a (ARows cols (rows_of t (d_data w)))
-                       | None => is_error a
-                       end
-           | None => is_error a
-           end
-         | _ => match a with ARows _ _ | AHist _ _ => want_commit r v t a | _ => true end   (* refusing is fine; rows must be the right ones *)
-         end
-k    if revdb_denotes r v then want_commit r v t a
-    else match (norm_base r (fst v), snd v) with
-         | (BBranch b, []) =>                         (* dirty branch: `db/branch` is the branch's working set *)
-           match branch_working r b with
-           | Some w => match assoc t (d_schema w) with
-                       | Some cols => ans_eqb a (ARows cols (rows_of t (d_data w)))
-                       | None => is_error a
-                       end
-           | None => is_error a
-           end
-         | _ => match a with ARows _ _ | AHist _ _ => want_commit r v t a | _ => true end   (* refusing is fine; rows must be the right ones *)
-         end
-_    if revdb_denotes r v then want_commit r v t a
-    else match (norm_base r (fst v), snd v) with
-         | (BBranch b, []) =>                         (* dirty branch: `db/branch` is the branch's working set *)
-           match branch_working r b with
-           | Some w => match assoc t (d_schema w) with
-                       | Some cols => ans_eqb a (ARows cols (rows_of t (d_data w)))
-                       | None => is_error a
-                       end
-           | None => is_error a
-           end
-         | _ => match a with ARows _ _ | AHist _ _ => want_commit r v t a | _ => true end   (* refusing is fine; rows must be the right ones *)
-         end
-s    if revdb_denotes r v then want_commit r v t a
-    else match (norm_base r (fst v), snd v) with
-         | (BBranch b, []) =>                         (* dirty branch: `db/branch` is the branch's working set *)
-           match branch_working r b with
-           | Some w => match assoc t (d_schema w) with
-                       | Some cols => ans_eqb a (ARows cols (rows_of t (d_data w)))
-                       | None => is_error a
-                       end
-           | None => is_error a
-           end
-         | _ => match a with ARows _ _ | AHist _ _ => want_commit r v t a | _ => true end   (* refusing is fine; rows must be the right ones *)
-         end
-t    if revdb_denotes r v then want_commit r v t a
-    else match (norm_base r (fst v), snd v) with
-         | (BBranch b, []) =>                         (* dirty branch: `db/branch` is the branch's working set *)
-           match branch_working r b with
-           | Some w => match assoc t (d_schema w) with
-                       | Some cols => ans_eqb a (ARows cols (rows_of t (d_data w)))
-                       | None => is_error a
-                       end
-           | None => is_error a
-           end
-         | _ => match a with ARows _ _ | AHist _ _ => want_commit r v t a | _ => true end   (* refusing is fine; rows must be the right ones *)
-         end
-a    if revdb_denotes r v then want_commit r v t a
-    else match (norm_base r (fst v), snd v) with
-         | (BBranch b, []) =>                         (* dirty branch: `db/branch` is the branch's working set *)
-           match branch_working r b with
-           | Some w => match assoc t (d_schema w) with
-                       | Some cols => ans_eqb a (ARows cols (rows_of t (d_data w)))
-                       | None => is_error a
-                       end
-           | None => is_error a
-           end
-         | _ => match a with ARows _ _ | AHist _ _ => want_commit r v t a | _ => true end   (* refusing is fine; rows must be the right ones *)
-         end
-t    if revdb_denotes r v then want_commit r v t a
-    else match (norm_base r (fst v), snd v) with
-         | (BBranch b, []) =>                         (* dirty branch: `db/branch` is the branch's working set *)
-           match branch_working r b with
-           | Some w => match assoc t (d_schema w) with
-                       | Some cols => ans_eqb a (ARows cols (rows_of t (d_data w)))
-                       | None => is_error a
-                       end
-           | None => is_error a
-           end
-         | _ => match a with ARows _ _ | AHist _ _ => want_commit r v t a | _ => true end   (* refusing is fine; rows must be the right ones *)
-         end
-e    if revdb_denotes r v then want_commit r v t a
-    else match (norm_base r (fst v), snd v) with
-         | (BBranch b, []) =>                         (* dirty branch: `db/branch` is the branch's working set *)
-           match branch_working r b with
-           | Some w => match assoc t (d_schema w) with
-                       | Some cols => ans_eqb a (ARows cols (rows_of t (d_data w)))
-                       | None => is_error a
-                       end
-           | None => is_error a
-           end
-         | _ => match a with ARows _ _ | AHist _ _ => want_commit r v t a | _ => true end   (* refusing is fine; rows must be the right ones *)
-         end
-     if revdb_denotes r v then want_commit r v t a
-    else match (norm_base r (fst v), snd v) with
-         | (BBranch b, []) =>                         (* dirty branch: `db/branch` is the branch's working set *)
-           match branch_working r b with
-           | Some w => match assoc t (d_schema w) with
-                       | Some cols => ans_eqb a (ARows cols (rows_of t (d_data w)))
-                       | None => is_error a
-                       end
-           | None => is_error a
-           end
-         | _ => match a with ARows _ _ | AHist _ _ => want_commit r v t a | _ => true end   (* refusing is fine; rows must be the right ones *)
-         end
-c    if revdb_denotes r v then want_commit r v t a
-    else match (norm_base r (fst v), snd v) with
-         | (BBranch b, []) =>                         (* dirty branch: `db/branch` is the branch's working set *)
-           match branch_working r b with
-           | Some w => match assoc t (d_schema w) with
-                       | Some cols => ans_eqb a (ARows cols (rows_of t (d_data w)))
-                       | None => is_error a
-                       end
-           | None => is_error a
-           end
-         | _ => match a with ARows _ _ | AHist _ _ => want_commit r v t a | _ => true end   (* refusing is fine; rows must be the right ones *)
-         end
-)    if revdb_denotes r v then want_commit r v t a
-    else match (norm_base r (fst v), snd v) with
-         | (BBranch b, []) =>                         (* dirty branch: `db/branch` is the branch's working set *)
-           match branch_working r b with
-           | Some w => match assoc t (d_schema w) with
-                       | Some cols => ans_eqb a (ARows cols (rows_of t (d_data w)))
-                       | None => is_error a
-                       end
-           | None => is_error a
-           end
-         | _ => match a with ARows _ _ | AHist _ _ => want_commit r v t a | _ => true end   (* refusing is fine; rows must be the right ones *)
-         end
-)    if revdb_denotes r v then want_commit r v t a
-    else match (norm_base r (fst v), snd v) with
-         | (BBranch b, []) =>                         (* dirty branch: `db/branch` is the branch's working set *)
-           match branch_working r b with
-           | Some w => match assoc t (d_schema w) with
-                       | Some cols => ans_eqb a (ARows cols (rows_of t (d_data w)))
-                       | None => is_error a
-                       end
-           | None => is_error a
-           end
-         | _ => match a with ARows _ _ | AHist _ _ => want_commit r v t a | _ => true end   (* refusing is fine; rows must be the right ones *)
-         end
-)    if revdb_denotes r v then want_commit r v t a
-    else match (norm_base r (fst v), snd v) with
-         | (BBranch b, []) =>                         (* dirty branch: `db/branch` is the branch's working set *)
-           match branch_working r b with
-           | Some w => match assoc t (d_schema w) with
-                       | Some cols => ans_eqb a (ARows cols (rows_of t (d_data w)))
-                       | None => is_error a
-                       end
-           | None => is_error a
-           end
-         | _ => match a with ARows _ _ | AHist _ _ => want_commit r v t a | _ => true end   (* refusing is fine; rows must be the right ones *)
-         end
-)    if revdb_denotes r v then want_commit r v t a
-    else match (norm_base r (fst v), snd v) with
-         | (BBranch b, []) =>                         (* dirty branch: `db/branch` is the branch's working set *)
-           match branch_working r b with
-           | Some w => match assoc t (d_schema w) with
-                       | Some cols => ans_eqb a (ARows cols (rows_of t (d_data w)))
-                       | None => is_error a
-                       end
-           | None => is_error a
-           end
-         | _ => match a with ARows _ _ | AHist _ _ => want_commit r v t a | _ => true end   (* refusing is fine; rows must be the right ones *)
-         end
-
-    if revdb_denotes r v then want_commit r v t a
-    else match (norm_base r (fst v), snd v) with
-         | (BBranch b, []) =>                         (* dirty branch: `db/branch` is the branch's working set *)
-           match branch_working r b with
-           | Some w => match assoc t (d_schema w) with
-                       | Some cols => ans_eqb a (ARows cols (rows_of t (d_data w)))
-                       | None => is_error a
-                       end
-           | None => is_error a
-           end
-         | _ => match a with ARows _ _ | AHist _ _ => want_commit r v t a | _ => true end   (* refusing is fine; rows must be the right ones *)
-         end
-     if revdb_denotes r v then want_commit r v t a
-    else match (norm_base r (fst v), snd v) with
-         | (BBranch b, []) =>                         (* dirty branch: `db/branch` is the branch's working set *)
-           match branch_working r b with
-           | Some w => match assoc t (d_schema w) with
-                       | Some cols => ans_eqb a (ARows cols (rows_of t (d_data w)))
-                       | None => is_error a
-                       end
-           | None => is_error a
-           end
-         | _ => match a with ARows _ _ | AHist _ _ => want_commit r v t a | _ => true end   (* refusing is fine; rows must be the right ones *)
-         end
-     if revdb_denotes r v then want_commit r v t a
-    else match (norm_base r (fst v), snd v) with
-         | (BBranch b, []) =>                         (* dirty branch: `db/branch` is the branch's working set *)
-           match branch_working r b with
-           | Some w => match assoc t (d_schema w) with
-                       | Some cols => ans_eqb a (ARows cols (rows_of t (d_data w)))
-                       | None => is_error a
-                       end
-           | None => is_error a
-           end
-         | _ => match a with ARows _ _ | AHist _ _ => want_commit r v t a | _ => true end   (* refusing is fine; rows must be the right ones *)
-         end
-     if revdb_denotes r v then want_commit r v t a
-    else match (norm_base r (fst v), snd v) with
-         | (BBranch b, []) =>                         (* dirty branch: `db/branch` is the branch's working set *)
-           match branch_working r b with
-           | Some w => match assoc t (d_schema w) with
-                       | Some cols => ans_eqb a (ARows cols (rows_of t (d_data w)))
-                       | None => is_error a
-                       end
-           | None => is_error a
-           end
-         | _ => match a with ARows _ _ | AHist _ _ => want_commit r v t a | _ => true end   (* refusing is fine; rows must be the right ones *)
-         end
-     if revdb_denotes r v then want_commit r v t a
-    else match (norm_base r (fst v), snd v) with
-         | (BBranch b, []) =>                         (* dirty branch: `db/branch` is the branch's working set *)
-           match branch_working r b with
-           | Some w => match assoc t (d_schema w) with
-                       | Some cols => ans_eqb a (ARows cols (rows_of t (d_data w)))
-                       | None => is_error a
-                       end
-           | None => is_error a
-           end
-         | _ => match a with ARows _ _ | AHist _ _ => want_commit r v t a | _ => true end   (* refusing is fine; rows must be the right ones *)
-         end
-     if revdb_denotes r v then want_commit r v t a
-    else match (norm_base r (fst v), snd v) with
-         | (BBranch b, []) =>                         (* dirty branch: `db/branch` is the branch's working set *)
-           match branch_working r b with
-           | Some w => match assoc t (d_schema w) with
-                       | Some cols => ans_eqb a (ARows cols (rows_of t (d_data w)))
-                       | None => is_error a
-                       end
-           | None => is_error a
-           end
-         | _ => match a with ARows _ _ | AHist _ _ => want_commit r v t a | _ => true end   (* refusing is fine; rows must be the right ones *)
-         end
-     if revdb_denotes r v then want_commit r v t a
-    else match (norm_base r (fst v), snd v) with
-         | (BBranch b, []) =>                         (* dirty branch: `db/branch` is the branch's working set *)
-           match branch_working r b with
-           | Some w => match assoc t (d_schema w) with
-                       | Some cols => ans_eqb a (ARows cols (rows_of t (d_data w)))
-                       | None => is_error a
-                       end
-           | None => is_error a
-           end
-         | _ => match a with ARows _ _ | AHist _ _ => want_commit r v t a | _ => true end   (* refusing is fine; rows must be the right ones *)
-         end
-     if revdb_denotes r v then want_commit r v t a
-    else match (norm_base r (fst v), snd v) with
-         | (BBranch b, []) =>                         (* dirty branch: `db/branch` is the branch's working set *)
-           match branch_working r b with
-           | Some w => match assoc t (d_schema w) with
-                       | Some cols => ans_eqb a (ARows cols (rows_of t (d_data w)))
-                       | None => is_error a
-                       end
-           | None => is_error a
-           end
-         | _ => match a with ARows _ _ | AHist _ _ => want_commit r v t a | _ => true end   (* refusing is fine; rows must be the right ones *)
-         end
-     if revdb_denotes r v then want_commit r v t a
-    else match (norm_base r (fst v), snd v) with
-         | (BBranch b, []) =>                         (* dirty branch: `db/branch` is the branch's working set *)
-           match branch_working r b with
-           | Some w => match assoc t (d_schema w) with
-                       | Some cols => ans_eqb a (ARows cols (rows_of t (d_data w)))
-                       | None => is_error a
-                       end
-           | None => is_error a
-           end
-         | _ => match a with ARows _ _ | AHist _ _ => want_commit r v t a | _ => true end   (* refusing is fine; rows must be the right ones *)
-         end
-     if revdb_denotes r v then want_commit r v t a
-    else match (norm_base r (fst v), snd v) with
-         | (BBranch b, []) =>                         (* dirty branch: `db/branch` is the branch's working set *)
-           match branch_working r b with
-           | Some w => match assoc t (d_schema w) with
-                       | Some cols => ans_eqb a (ARows cols (rows_of t (d_data w)))
-                       | None => is_error a
-                       end
-           | None => is_error a
-           end
-         | _ => match a with ARows _ _ | AHist _ _ => want_commit r v t a | _ => true end   (* refusing is fine; rows must be the right ones *)
-         end
-     if revdb_denotes r v then want_commit r v t a
-    else match (norm_base r (fst v), snd v) with
-         | (BBranch b, []) =>                         (* dirty branch: `db/branch` is the branch's working set *)
-           match branch_working r b with
-           | Some w => match assoc t (d_schema w) with
-                       | Some cols => ans_eqb a (ARows cols (rows_of t (d_data w)))
-                       | None => is_error a
-                       end
-           | None => is_error a
-           end
-         | _ => match a with ARows _ _ | AHist _ _ => want_commit r v t a | _ => true end   (* refusing is fine; rows must be the right ones *)
-         end
-     if revdb_denotes r v then want_commit r v t a
-    else match (norm_base r (fst v), snd v) with
-         | (BBranch b, []) =>                         (* dirty branch: `db/branch` is the branch's working set *)
-           match branch_working r b with
-           | Some w => match assoc t (d_schema w) with
-                       | Some cols => ans_eqb a (ARows cols (rows_of t (d_data w)))
-                       | None => is_error a
-                       end
-           | None => is_error a
-           end
-         | _ => match a with ARows _ _ | AHist _ _ => want_commit r v t a | _ => true end   (* refusing is fine; rows must be the right ones *)
-         end
-     if revdb_denotes r v then want_commit r v t a
-    else match (norm_base r (fst v), snd v) with
-         | (BBranch b, []) =>                         (* dirty branch: `db/branch` is the branch's working set *)
-           match branch_working r b with
-           | Some w => match assoc t (d_schema w) with
-                       | Some cols => ans_eqb a (ARows cols (rows_of t (d_data w)))
-                       | None => is_error a
-                       end
-           | None => is_error a
-           end
-         | _ => match a with ARows _ _ | AHist _ _ => want_commit r v t a | _ => true end   (* refusing is fine; rows must be the right ones *)
-         end
-     if revdb_denotes r v then want_commit r v t a
-    else match (norm_base r (fst v), snd v) with
-         | (BBranch b, []) =>                         (* dirty branch: `db/branch` is the branch's working set *)
-           match branch_working r b with
-           | Some w => match assoc t (d_schema w) with
-                       | Some cols => ans_eqb a (ARows cols (rows_of t (d_data w)))
-                       | None => is_error a
-                       end
-           | None => is_error a
-           end
-         | _ => match a with ARows _ _ | AHist _ _ => want_commit r v t a | _ => true end   (* refusing is fine; rows must be the right ones *)
-         end
-     if revdb_denotes r v then want_commit r v t a
-    else match (norm_base r (fst v), snd v) with
-         | (BBranch b, []) =>                         (* dirty branch: `db/branch` is the branch's working set *)
-           match branch_working r b with
-           | Some w => match assoc t (d_schema w) with
-                       | Some cols => ans_eqb a (ARows cols (rows_of t (d_data w)))
-                       | None => is_error a
-                       end
-           | None => is_error a
-           end
-         | _ => match a with ARows _ _ | AHist _ _ => want_commit r v t a | _ => true end   (* refusing is fine; rows must be the right ones *)
-         end
-     if revdb_denotes r v then want_commit r v t a
-    else match (norm_base r (fst v), snd v) with
-         | (BBranch b, []) =>                         (* dirty branch: `db/branch` is the branch's working set *)
-           match branch_working r b with
-           | Some w => match assoc t (d_schema w) with
-                       | Some cols => ans_eqb a (ARows cols (rows_of t (d_data w)))
-                       | None => is_error a
-                       end
-           | None => is_error a
-           end
-         | _ => match a with ARows _ _ | AHist _ _ => want_commit r v t a | _ => true end   (* refusing is fine; rows must be the right ones *)
-         end
-     if revdb_denotes r v then want_commit r v t a
-    else match (norm_base r (fst v), snd v) with
-         | (BBranch b, []) =>                         (* dirty branch: `db/branch` is the branch's working set *)
-           match branch_working r b with
-           | Some w => match assoc t (d_schema w) with
-                       | Some cols => ans_eqb a (ARows cols (rows_of t (d_data w)))
-                       | None => is_error a
-                       end
-           | None => is_error a
-           end
-         | _ => match a with ARows _ _ | AHist _ _ => want_commit r v t a | _ => true end   (* refusing is fine; rows must be the right ones *)
-         end
-     if revdb_denotes r v then want_commit r v t a
-    else match (norm_base r (fst v), snd v) with
-         | (BBranch b, []) =>                         (* dirty branch: `db/branch` is the branch's working set *)
-           match branch_working r b with
-           | Some w => match assoc t (d_schema w) with
-                       | Some cols => ans_eqb a (ARows cols (rows_of t (d_data w)))
-                       | None => is_error a
-                       end
-           | None => is_error a
-           end
-         | _ => match a with ARows _ _ | AHist _ _ => want_commit r v t a | _ => true end   (* refusing is fine; rows must be the right ones *)
-         end
-     if revdb_denotes r v then want_commit r v t a
-    else match (norm_base r (fst v), snd v) with
-         | (BBranch b, []) =>                         (* dirty branch: `db/branch` is the branch's working set *)
-           match branch_working r b with
-           | Some w => match assoc t (d_schema w) with
-                       | Some cols => ans_eqb a (ARows cols (rows_of t (d_data w)))
-                       | None => is_error a
-                       end
-           | None => is_error a
-           end
-         | _ => match a with ARows _ _ | AHist _ _ => want_commit r v t a | _ => true end   (* refusing is fine; rows must be the right ones *)
-         end
-     if revdb_denotes r v then want_commit r v t a
-    else match (norm_base r (fst v), snd v) with
-         | (BBranch b, []) =>                         (* dirty branch: `db/branch` is the branch's working set *)
-           match branch_working r b with
-           | Some w => match assoc t (d_schema w) with
-                       | Some cols => ans_eqb a (ARows cols (rows_of t (d_data w)))
-                       | None => is_error a
-                       end
-           | None => is_error a
-           end
-         | _ => match a with ARows _ _ | AHist _ _ => want_commit r v t a | _ => true end   (* refusing is fine; rows must be the right ones *)
-         end
-     if revdb_denotes r v then want_commit r v t a
-    else match (norm_base r (fst v), snd v) with
-         | (BBranch b, []) =>                         (* dirty branch: `db/branch` is the branch's working set *)
-           match branch_working r b with
-           | Some w => match assoc t (d_schema w) with
-                       | Some cols => ans_eqb a (ARows cols (rows_of t (d_data w)))
-                       | None => is_error a
-                       end
-           | None => is_error a
-           end
-         | _ => match a with ARows _ _ | AHist _ _ => want_commit r v t a | _ => true end   (* refusing is fine; rows must be the right ones *)
-         end
-     if revdb_denotes r v then want_commit r v t a
-    else match (norm_base r (fst v), snd v) with
-         | (BBranch b, []) =>                         (* dirty branch: `db/branch` is the branch's working set *)
-           match branch_working r b with
-           | Some w => match assoc t (d_schema w) with
-                       | Some cols => ans_eqb a (ARows cols (rows_of t (d_data w)))
-                       | None => is_error a
-                       end
-           | None => is_error a
-           end
-         | _ => match a with ARows _ _ | AHist _ _ => want_commit r v t a | _ => true end   (* refusing is fine; rows must be the right ones *)
-         end
-     if revdb_denotes r v then want_commit r v t a
-    else match (norm_base r (fst v), snd v) with
-         | (BBranch b, []) =>                         (* dirty branch: `db/branch` is the branch's working set *)
-           match branch_working r b with
-           | Some w => match assoc t (d_schema w) with
-                       | Some cols => ans_eqb a (ARows cols (rows_of t (d_data w)))
-                       | None => is_error a
-                       end
-           | None => is_error a
-           end
-         | _ => match a with ARows _ _ | AHist _ _ => want_commit r v t a | _ => true end   (* refusing is fine; rows must be the right ones *)
-         end
-     if revdb_denotes r v then want_commit r v t a
-    else match (norm_base r (fst v), snd v) with
-         | (BBranch b, []) =>                         (* dirty branch: `db/branch` is the branch's working set *)
-           match branch_working r b with
-           | Some w => match assoc t (d_schema w) with
-                       | Some cols => ans_eqb a (ARows cols (rows_of t (d_data w)))
-                       | None => is_error a
-                       end
-           | None => is_error a
-           end
-         | _ => match a with ARows _ _ | AHist _ _ => want_commit r v t a | _ => true end   (* refusing is fine; rows must be the right ones *)
-         end
-     if revdb_denotes r v then want_commit r v t a
-    else match (norm_base r (fst v), snd v) with
-         | (BBranch b, []) =>                         (* dirty branch: `db/branch` is the branch's working set *)
-           match branch_working r b with
-           | Some w => match assoc t (d_schema w) with
-                       | Some cols => ans_eqb a (ARows cols (rows_of t (d_data w)))
-                       | None => is_error a
-                       end
-           | None => is_error a
-           end
-         | _ => match a with ARows _ _ | AHist _ _ => want_commit r v t a | _ => true end   (* refusing is fine; rows must be the right ones *)
-         end
-     if revdb_denotes r v then want_commit r v t a
-    else match (norm_base r (fst v), snd v) with
-         | (BBranch b, []) =>                         (* dirty branch: `db/branch` is the branch's working set *)
-           match branch_working r b with
-           | Some w => match assoc t (d_schema w) with
-                       | Some cols => ans_eqb a (ARows cols (rows_of t (d_data w)))
-                       | None => is_error a
-                       end
-           | None => is_error a
-           end
-         | _ => match a with ARows _ _ | AHist _ _ => want_commit r v t a | _ => true end   (* refusing is fine; rows must be the right ones *)
-         end
-     if revdb_denotes r v then want_commit r v t a
-    else match (norm_base r (fst v), snd v) with
-         | (BBranch b, []) =>                         (* dirty branch: `db/branch` is the branch's working set *)
-           match branch_working r b with
-           | Some w => match assoc t (d_schema w) with
-                       | Some cols => ans_eqb a (ARows cols (rows_of t (d_data w)))
-                       | None => is_error a
-                       end
-           | None => is_error a
-           end
-         | _ => match a with ARows _ _ | AHist _ _ => want_commit r v t a | _ => true end   (* refusing is fine; rows must be the right ones *)
-         end
-|    if revdb_denotes r v then want_commit r v t a
-    else match (norm_base r (fst v), snd v) with
-         | (BBranch b, []) =>                         (* dirty branch: `db/branch` is the branch's working set *)
-           match branch_working r b with
-           | Some w => match assoc t (d_schema w) with
-                       | Some cols => ans_eqb a (ARows cols (rows_of t (d_data w)))
-                       | None => is_error a
-                       end
-           | None => is_error a
-           end
-         | _ => match a with ARows _ _ | AHist _ _ => want_commit r v t a | _ => true end   (* refusing is fine; rows must be the right ones *)
-         end
-     if revdb_denotes r v then want_commit r v t a
-    else match (norm_base r (fst v), snd v) with
-         | (BBranch b, []) =>                         (* dirty branch: `db/branch` is the branch's working set *)
-           match branch_working r b with
-           | Some w => match assoc t (d_schema w) with
-                       | Some cols => ans_eqb a (ARows cols (rows_of t (d_data w)))
-                       | None => is_error a
-                       end
-           | None => is_error a
-           end
-         | _ => match a with ARows _ _ | AHist _ _ => want_commit r v t a | _ => true end   (* refusing is fine; rows must be the right ones *)
-         end
-N    if revdb_denotes r v then want_commit r v t a
-    else match (norm_base r (fst v), snd v) with
-         | (BBranch b, []) =>                         (* dirty branch: `db/branch` is the branch's working set *)
-           match branch_working r b with
-           | Some w => match assoc t (d_schema w) with
-                       | Some cols => ans_eqb a (ARows cols (rows_of t (d_data w)))
-                       | None => is_error a
-                       end
-           | None => is_error a
-           end
-         | _ => match a with ARows _ _ | AHist _ _ => want_commit r v t a | _ => true end   (* refusing is fine; rows must be the right ones *)
-         end
-o    if revdb_denotes r v then want_commit r v t a
-    else match (norm_base r (fst v), snd v) with
-         | (BBranch b, []) =>                         (* dirty branch: `db/branch` is the branch's working set *)
-           match branch_working r b with
-           | Some w => match assoc t (d_schema w) with
-                       | Some cols => ans_eqb a (ARows cols (rows_of t (d_data w)))
-                       | None => is_error a
-                       end
-           | None => is_error a
-           end
-         | _ => match a with ARows _ _ | AHist _ _ => want_commit r v t a | _ => true end   (* refusing is fine; rows must be the right ones *)
-         end
-n    if revdb_denotes r v then want_commit r v t a
-    else match (norm_base r (fst v), snd v) with
-         | (BBranch b, []) =>                         (* dirty branch: `db/branch` is the branch's working set *)
-           match branch_working r b with
-           | Some w => match assoc t (d_schema w) with
-                       | Some cols => ans_eqb a (ARows cols (rows_of t (d_data w)))
-                       | None => is_error a
-                       end
-           | None => is_error a
-           end
-         | _ => match a with ARows _ _ | AHist _ _ => want_commit r v t a | _ => true end   (* refusing is fine; rows must be the right ones *)
-         end
-e    if revdb_denotes r v then want_commit r v t a
-    else match (norm_base r (fst v), snd v) with
-         | (BBranch b, []) =>                         (* dirty branch: `db/branch` is the branch's working set *)
-           match branch_working r b with
-           | Some w => match assoc t (d_schema w) with
-                       | Some cols => ans_eqb a (ARows cols (rows_of t (d_data w)))
-                       | None => is_error a
-                       end
-           | None => is_error a
-           end
-         | _ => match a with ARows _ _ | AHist _ _ => want_commit r v t a | _ => true end   (* refusing is fine; rows must be the right ones *)
-         end
-     if revdb_denotes r v then want_commit r v t a
-    else match (norm_base r (fst v), snd v) with
-         | (BBranch b, []) =>                         (* dirty branch: `db/branch` is the branch's working set *)
-           match branch_working r b with
-           | Some w => match assoc t (d_schema w) with
-                       | Some cols => ans_eqb a (ARows cols (rows_of t (d_data w)))
-                       | None => is_error a
-                       end
-           | None => is_error a
-           end
-         | _ => match a with ARows _ _ | AHist _ _ => want_commit r v t a | _ => true end   (* refusing is fine; rows must be the right ones *)
-         end
-=    if revdb_denotes r v then want_commit r v t a
-    else match (norm_base r (fst v), snd v) with
-         | (BBranch b, []) =>                         (* dirty branch: `db/branch` is the branch's working set *)
-           match branch_working r b with
-           | Some w => match assoc t (d_schema w) with
-                       | Some cols => ans_eqb a (ARows cols (rows_of t (d_data w)))
-                       | None => is_error a
-                       end
-           | None => is_error a
-           end
-         | _ => match a with ARows _ _ | AHist _ _ => want_commit r v t a | _ => true end   (* refusing is fine; rows must be the right ones *)
-         end
->    if revdb_denotes r v then want_commit r v t a
-    else match (norm_base r (fst v), snd v) with
-         | (BBranch b, []) =>                         (* dirty branch: `db/branch` is the branch's working set *)
-           match branch_working r b with
-           | Some w => match assoc t (d_schema w) with
-                       | Some cols => ans_eqb a (ARows cols (rows_of t (d_data w)))
-                       | None => is_error a
-                       end
-           | None => is_error a
-           end
-         | _ => match a with ARows _ _ | AHist _ _ => want_commit r v t a | _ => true end   (* refusing is fine; rows must be the right ones *)
-         end
-     if revdb_denotes r v then want_commit r v t a
-    else match (norm_base r (fst v), snd v) with
-         | (BBranch b, []) =>                         (* dirty branch: `db/branch` is the branch's working set *)
-           match branch_working r b with
-           | Some w => match assoc t (d_schema w) with
-                       | Some cols => ans_eqb a (ARows cols (rows_of t (d_data w)))
-                       | None => is_error a
-                       end
-           | None => is_error a
-           end
-         | _ => match a with ARows _ _ | AHist _ _ => want_commit r v t a | _ => true end   (* refusing is fine; rows must be the right ones *)
-         end
-i    if revdb_denotes r v then want_commit r v t a
-    else match (norm_base r (fst v), snd v) with
-         | (BBranch b, []) =>                         (* dirty branch: `db/branch` is the branch's working set *)
-           match branch_working r b with
-           | Some w => match assoc t (d_schema w) with
-                       | Some cols => ans_eqb a (ARows cols (rows_of t (d_data w)))
-                       | None => is_error a
-                       end
-           | None => is_error a
-           end
-         | _ => match a with ARows _ _ | AHist _ _ => want_commit r v t a | _ => true end   (* refusing is fine; rows must be the right ones *)
-         end
-s    if revdb_denotes r v then want_commit r v t a
-    else match (norm_base r (fst v), snd v) with
-         | (BBranch b, []) =>                         (* dirty branch: `db/branch` is the branch's working set *)
-           match branch_working r b with
-           | Some w => match assoc t (d_schema w) with
-                       | Some cols => ans_eqb a (ARows cols (rows_of t (d_data w)))
-                       | None => is_error a
-                       end
-           | None => is_error a
-           end
-         | _ => match a with ARows _ _ | AHist _ _ => want_commit r v t a | _ => true end   (* refusing is fine; rows must be the right ones *)
-         end
-_    if revdb_denotes r v then want_commit r v t a
-    else match (norm_base r (fst v), snd v) with
-         | (BBranch b, []) =>                         (* dirty branch: `db/branch` is the branch's working set *)
-           match branch_working r b with
-           | Some w => match assoc t (d_schema w) with
-                       | Some cols => ans_eqb a (ARows cols (rows_of t (d_data w)))
-                       | None => is_error a
-                       end
-           | None => is_error a
-           end
-         | _ => match a with ARows _ _ | AHist _ _ => want_commit r v t a | _ => true end   (* refusing is fine; rows must be the right ones *)
-         end
-e    if revdb_denotes r v then want_commit r v t a
-    else match (norm_base r (fst v), snd v) with
-         | (BBranch b, []) =>                         (* dirty branch: `db/branch` is the branch's working set *)
-           match branch_working r b with
-           | Some w => match assoc t (d_schema w) with
-                       | Some cols => ans_eqb a (ARows cols (rows_of t (d_data w)))
-                       | None => is_error a
-                       end
-           | None => is_error a
-           end
-         | _ => match a with ARows _ _ | AHist _ _ => want_commit r v t a | _ => true end   (* refusing is fine; rows must be the right ones *)
-         end
-r    if revdb_denotes r v then want_commit r v t a
-    else match (norm_base r (fst v), snd v) with
-         | (BBranch b, []) =>                         (* dirty branch: `db/branch` is the branch's working set *)
-           match branch_working r b with
-           | Some w => match assoc t (d_schema w) with
-                       | Some cols => ans_eqb a (ARows cols (rows_of t (d_data w)))
-                       | None => is_error a
-                       end
-           | None => is_error a
-           end
-         | _ => match a with ARows _ _ | AHist _ _ => want_commit r v t a | _ => true end   (* refusing is fine; rows must be the right ones *)
-         end
-r    if revdb_denotes r v then want_commit r v t a
-    else match (norm_base r (fst v), snd v) with
-         | (BBranch b, []) =>                         (* dirty branch: `db/branch` is the branch's working set *)
-           match branch_working r b with
-           | Some w => match assoc t (d_schema w) with
-                       | Some cols => ans_eqb a (ARows cols (rows_of t (d_data w)))
-                       | None => is_error a
-                       end
-           | None => is_error a
-           end
-         | _ => match a with ARows _ _ | AHist _ _ => want_commit r v t a | _ => true end   (* refusing is fine; rows must be the right ones *)
-         end
-o    if revdb_denotes r v then want_commit r v t a
-    else match (norm_base r (fst v), snd v) with
-         | (BBranch b, []) =>                         (* dirty branch: `db/branch` is the branch's working set *)
-           match branch_working r b with
-           | Some w => match assoc t (d_schema w) with
-                       | Some cols => ans_eqb a (ARows cols (rows_of t (d_data w)))
-                       | None => is_error a
-                       end
-           | None => is_error a
-           end
-         | _ => match a with ARows _ _ | AHist _ _ => want_commit r v t a | _ => true end   (* refusing is fine; rows must be the right ones *)
-         end
-r    if revdb_denotes r v then want_commit r v t a
-    else match (norm_base r (fst v), snd v) with
-         | (BBranch b, []) =>                         (* dirty branch: `db/branch` is the branch's working set *)
-           match branch_working r b with
-           | Some w => match assoc t (d_schema w) with
-                       | Some cols => ans_eqb a (ARows cols (rows_of t (d_data w)))
-                       | None => is_error a
-                       end
-           | None => is_error a
-           end
-         | _ => match a with ARows _ _ | AHist _ _ => want_commit r v t a | _ => true end   (* refusing is fine; rows must be the right ones *)
-         end
-     if revdb_denotes r v then want_commit r v t a
-    else match (norm_base r (fst v), snd v) with
-         | (BBranch b, []) =>                         (* dirty branch: `db/branch` is the branch's working set *)
-           match branch_working r b with
-           | Some w => match assoc t (d_schema w) with
-                       | Some cols => ans_eqb a (ARows cols (rows_of t (d_data w)))
-                       | None => is_error a
-                       end
-           | None => is_error a
-           end
-         | _ => match a with ARows _ _ | AHist _ _ => want_commit r v t a | _ => true end   (* refusing is fine; rows must be the right ones *)
-         end
-a    if revdb_denotes r v then want_commit r v t a
-    else match (norm_base r (fst v), snd v) with
-         | (BBranch b, []) =>                         (* dirty branch: `db/branch` is the branch's working set *)
-           match branch_working r b with
-           | Some w => match assoc t (d_schema w) with
-                       | Some cols => ans_eqb a (ARows cols (rows_of t (d_data w)))
-                       | None => is_error a
-                       end
-           | None => is_error a
-           end
-         | _ => match a with ARows _ _ | AHist _ _ => want_commit r v t a | _ => true end   (* refusing is fine; rows must be the right ones *)
-         end
-
-    if revdb_denotes r v then want_commit r v t a
-    else match (norm_base r (fst v), snd v) with
-         | (BBranch b, []) =>                         (* dirty branch: `db/branch` is the branch's working set *)
-           match branch_working r b with
-           | Some w => match assoc t (d_schema w) with
-                       | Some cols => ans_eqb a (ARows cols (rows_of t (d_data w)))
-                       | None => is_error a
-                       end
-           | None => is_error a
-           end
-         | _ => match a with ARows _ _ | AHist _ _ => want_commit r v t a | _ => true end   (* refusing is fine; rows must be the right ones *)
-         end
-     if revdb_denotes r v then want_commit r v t a
-    else match (norm_base r (fst v), snd v) with
-         | (BBranch b, []) =>                         (* dirty branch: `db/branch` is the branch's working set *)
-           match branch_working r b with
-           | Some w => match assoc t (d_schema w) with
-                       | Some cols => ans_eqb a (ARows cols (rows_of t (d_data w)))
-                       | None => is_error a
-                       end
-           | None => is_error a
-           end
-         | _ => match a with ARows _ _ | AHist _ _ => want_commit r v t a | _ => true end   (* refusing is fine; rows must be the right ones *)
-         end
-     if revdb_denotes r v then want_commit r v t a
-    else match (norm_base r (fst v), snd v) with
-         | (BBranch b, []) =>                         (* dirty branch: `db/branch` is the branch's working set *)
-           match branch_working r b with
-           | Some w => match assoc t (d_schema w) with
-                       | Some cols => ans_eqb a (ARows cols (rows_of t (d_data w)))
-                       | None => is_error a
-                       end
-           | None => is_error a
-           end
-         | _ => match a with ARows _ _ | AHist _ _ => want_commit r v t a | _ => true end   (* refusing is fine; rows must be the right ones *)
-         end
-     if revdb_denotes r v then want_commit r v t a
-    else match (norm_base r (fst v), snd v) with
-         | (BBranch b, []) =>                         (* dirty branch: `db/branch` is the branch's working set *)
-           match branch_working r b with
-           | Some w => match assoc t (d_schema w) with
-                       | Some cols => ans_eqb a (ARows cols (rows_of t (d_data w)))
-                       | None => is_error a
-                       end
-           | None => is_error a
-           end
-         | _ => match a with ARows _ _ | AHist _ _ => want_commit r v t a | _ => true end   (* refusing is fine; rows must be the right ones *)
-         end
-     if revdb_denotes r v then want_commit r v t a
-    else match (norm_base r (fst v), snd v) with
-         | (BBranch b, []) =>                         (* dirty branch: `db/branch` is the branch's working set *)
-           match branch_working r b with
-           | Some w => match assoc t (d_schema w) with
-                       | Some cols => ans_eqb a (ARows cols (rows_of t (d_data w)))
-                       | None => is_error a
-                       end
-           | None => is_error a
-           end
-         | _ => match a with ARows _ _ | AHist _ _ => want_commit r v t a | _ => true end   (* refusing is fine; rows must be the right ones *)
-         end
-     if revdb_denotes r v then want_commit r v t a
-    else match (norm_base r (fst v), snd v) with
-         | (BBranch b, []) =>                         (* dirty branch: `db/branch` is the branch's working set *)
-           match branch_working r b with
-           | Some w => match assoc t (d_schema w) with
-                       | Some cols => ans_eqb a (ARows cols (rows_of t (d_data w)))
-                       | None => is_error a
-                       end
-           | None => is_error a
-           end
-         | _ => match a with ARows _ _ | AHist _ _ => want_commit r v t a | _ => true end   (* refusing is fine; rows must be the right ones *)
-         end
-     if revdb_denotes r v then want_commit r v t a
-    else match (norm_base r (fst v), snd v) with
-         | (BBranch b, []) =>                         (* dirty branch: `db/branch` is the branch's working set *)
-           match branch_working r b with
-           | Some w => match assoc t (d_schema w) with
-                       | Some cols => ans_eqb a (ARows cols (rows_of t (d_data w)))
-                       | None => is_error a
-                       end
-           | None => is_error a
-           end
-         | _ => match a with ARows _ _ | AHist _ _ => want_commit r v t a | _ => true end   (* refusing is fine; rows must be the right ones *)
-         end
-     if revdb_denotes r v then want_commit r v t a
-    else match (norm_base r (fst v), snd v) with
-         | (BBranch b, []) =>                         (* dirty branch: `db/branch` is the branch's working set *)
-           match branch_working r b with
-           | Some w => match assoc t (d_schema w) with
-                       | Some cols => ans_eqb a (ARows cols (rows_of t (d_data w)))
-                       | None => is_error a
-                       end
-           | None => is_error a
-           end
-         | _ => match a with ARows _ _ | AHist _ _ => want_commit r v t a | _ => true end   (* refusing is fine; rows must be the right ones *)
-         end
-     if revdb_denotes r v then want_commit r v t a
-    else match (norm_base r (fst v), snd v) with
-         | (BBranch b, []) =>                         (* dirty branch: `db/branch` is the branch's working set *)
-           match branch_working r b with
-           | Some w => match assoc t (d_schema w) with
-                       | Some cols => ans_eqb a (ARows cols (rows_of t (d_data w)))
-                       | None => is_error a
-                       end
-           | None => is_error a
-           end
-         | _ => match a with ARows _ _ | AHist _ _ => want_commit r v t a | _ => true end   (* refusing is fine; rows must be the right ones *)
-         end
-     if revdb_denotes r v then want_commit r v t a
-    else match (norm_base r (fst v), snd v) with
-         | (BBranch b, []) =>                         (* dirty branch: `db/branch` is the branch's working set *)
-           match branch_working r b with
-           | Some w => match assoc t (d_schema w) with
-                       | Some cols => ans_eqb a (ARows cols (rows_of t (d_data w)))
-                       | None => is_error a
-                       end
-           | None => is_error a
-           end
-         | _ => match a with ARows _ _ | AHist _ _ => want_commit r v t a | _ => true end   (* refusing is fine; rows must be the right ones *)
-         end
-     if revdb_denotes r v then want_commit r v t a
-    else match (norm_base r (fst v), snd v) with
-         | (BBranch b, []) =>                         (* dirty branch: `db/branch` is the branch's working set *)
-           match branch_working r b with
-           | Some w => match assoc t (d_schema w) with
-                       | Some cols => ans_eqb a (ARows cols (rows_of t (d_data w)))
-                       | None => is_error a
-                       end
-           | None => is_error a
-           end
-         | _ => match a with ARows _ _ | AHist _ _ => want_commit r v t a | _ => true end   (* refusing is fine; rows must be the right ones *)
-         end
-     if revdb_denotes r v then want_commit r v t a
-    else match (norm_base r (fst v), snd v) with
-         | (BBranch b, []) =>                         (* dirty branch: `db/branch` is the branch's working set *)
-           match branch_working r b with
-           | Some w => match assoc t (d_schema w) with
-                       | Some cols => ans_eqb a (ARows cols (rows_of t (d_data w)))
-                       | None => is_error a
-                       end
-           | None => is_error a
-           end
-         | _ => match a with ARows _ _ | AHist _ _ => want_commit r v t a | _ => true end   (* refusing is fine; rows must be the right ones *)
-         end
-     if revdb_denotes r v then want_commit r v t a
-    else match (norm_base r (fst v), snd v) with
-         | (BBranch b, []) =>                         (* dirty branch: `db/branch` is the branch's working set *)
-           match branch_working r b with
-           | Some w => match assoc t (d_schema w) with
-                       | Some cols => ans_eqb a (ARows cols (rows_of t (d_data w)))
-                       | None => is_error a
-                       end
-           | None => is_error a
-           end
-         | _ => match a with ARows _ _ | AHist _ _ => want_commit r v t a | _ => true end   (* refusing is fine; rows must be the right ones *)
-         end
-     if revdb_denotes r v then want_commit r v t a
-    else match (norm_base r (fst v), snd v) with
-         | (BBranch b, []) =>                         (* dirty branch: `db/branch` is the branch's working set *)
-           match branch_working r b with
-           | Some w => match assoc t (d_schema w) with
-                       | Some cols => ans_eqb a (ARows cols (rows_of t (d_data w)))
-                       | None => is_error a
-                       end
-           | None => is_error a
-           end
-         | _ => match a with ARows _ _ | AHist _ _ => want_commit r v t a | _ => true end   (* refusing is fine; rows must be the right ones *)
-         end
-     if revdb_denotes r v then want_commit r v t a
-    else match (norm_base r (fst v), snd v) with
-         | (BBranch b, []) =>                         (* dirty branch: `db/branch` is the branch's working set *)
-           match branch_working r b with
-           | Some w => match assoc t (d_schema w) with
-                       | Some cols => ans_eqb a (ARows cols (rows_of t (d_data w)))
-                       | None => is_error a
-                       end
-           | None => is_error a
-           end
-         | _ => match a with ARows _ _ | AHist _ _ => want_commit r v t a | _ => true end   (* refusing is fine; rows must be the right ones *)
-         end
-     if revdb_denotes r v then want_commit r v t a
-    else match (norm_base r (fst v), snd v) with
-         | (BBranch b, []) =>                         (* dirty branch: `db/branch` is the branch's working set *)
-           match branch_working r b with
-           | Some w => match assoc t (d_schema w) with
-                       | Some cols => ans_eqb a (ARows cols (rows_of t (d_data w)))
-                       | None => is_error a
-                       end
-           | None => is_error a
-           end
-         | _ => match a with ARows _ _ | AHist _ _ => want_commit r v t a | _ => true end   (* refusing is fine; rows must be the right ones *)
-         end
-     if revdb_denotes r v then want_commit r v t a
-    else match (norm_base r (fst v), snd v) with
-         | (BBranch b, []) =>                         (* dirty branch: `db/branch` is the branch's working set *)
-           match branch_working r b with
-           | Some w => match assoc t (d_schema w) with
-                       | Some cols => ans_eqb a (ARows cols (rows_of t (d_data w)))
-                       | None => is_error a
-                       end
-           | None => is_error a
-           end
-         | _ => match a with ARows _ _ | AHist _ _ => want_commit r v t a | _ => true end   (* refusing is fine; rows must be the right ones *)
-         end
-     if revdb_denotes r v then want_commit r v t a
-    else match (norm_base r (fst v), snd v) with
-         | (BBranch b, []) =>                         (* dirty branch: `db/branch` is the branch's working set *)
-           match branch_working r b with
-           | Some w => match assoc t (d_schema w) with
-                       | Some cols => ans_eqb a (ARows cols (rows_of t (d_data w)))
-                       | None => is_error a
-                       end
-           | None => is_error a
-           end
-         | _ => match a with ARows _ _ | AHist _ _ => want_commit r v t a | _ => true end   (* refusing is fine; rows must be the right ones *)
-         end
-     if revdb_denotes r v then want_commit r v t a
-    else match (norm_base r (fst v), snd v) with
-         | (BBranch b, []) =>                         (* dirty branch: `db/branch` is the branch's working set *)
-           match branch_working r b with
-           | Some w => match assoc t (d_schema w) with
-                       | Some cols => ans_eqb a (ARows cols (rows_of t (d_data w)))
-                       | None => is_error a
-                       end
-           | None => is_error a
-           end
-         | _ => match a with ARows _ _ | AHist _ _ => want_commit r v t a | _ => true end   (* refusing is fine; rows must be the right ones *)
-         end
-     if revdb_denotes r v then want_commit r v t a
-    else match (norm_base r (fst v), snd v) with
-         | (BBranch b, []) =>                         (* dirty branch: `db/branch` is the branch's working set *)
-           match branch_working r b with
-           | Some w => match assoc t (d_schema w) with
-                       | Some cols => ans_eqb a (ARows cols (rows_of t (d_data w)))
-                       | None => is_error a
-                       end
-           | None => is_error a
-           end
-         | _ => match a with ARows _ _ | AHist _ _ => want_commit r v t a | _ => true end   (* refusing is fine; rows must be the right ones *)
-         end
-     if revdb_denotes r v then want_commit r v t a
-    else match (norm_base r (fst v), snd v) with
-         | (BBranch b, []) =>                         (* dirty branch: `db/branch` is the branch's working set *)
-           match branch_working r b with
-           | Some w => match assoc t (d_schema w) with
-                       | Some cols => ans_eqb a (ARows cols (rows_of t (d_data w)))
-                       | None => is_error a
-                       end
-           | None => is_error a
-           end
-         | _ => match a with ARows _ _ | AHist _ _ => want_commit r v t a | _ => true end   (* refusing is fine; rows must be the right ones *)
-         end
-     if revdb_denotes r v then want_commit r v t a
-    else match (norm_base r (fst v), snd v) with
-         | (BBranch b, []) =>                         (* dirty branch: `db/branch` is the branch's working set *)
-           match branch_working r b with
-           | Some w => match assoc t (d_schema w) with
-                       | Some cols => ans_eqb a (ARows cols (rows_of t (d_data w)))
-                       | None => is_error a
-                       end
-           | None => is_error a
-           end
-         | _ => match a with ARows _ _ | AHist _ _ => want_commit r v t a | _ => true end   (* refusing is fine; rows must be the right ones *)
-         end
-     if revdb_denotes r v then want_commit r v t a
-    else match (norm_base r (fst v), snd v) with
-         | (BBranch b, []) =>                         (* dirty branch: `db/branch` is the branch's working set *)
-           match branch_working r b with
-           | Some w => match assoc t (d_schema w) with
-                       | Some cols => ans_eqb a (ARows cols (rows_of t (d_data w)))
-                       | None => is_error a
-                       end
-           | None => is_error a
-           end
-         | _ => match a with ARows _ _ | AHist _ _ => want_commit r v t a | _ => true end   (* refusing is fine; rows must be the right ones *)
-         end
-     if revdb_denotes r v then want_commit r v t a
-    else match (norm_base r (fst v), snd v) with
-         | (BBranch b, []) =>                         (* dirty branch: `db/branch` is the branch's working set *)
-           match branch_working r b with
-           | Some w => match assoc t (d_schema w) with
-                       | Some cols => ans_eqb a (ARows cols (rows_of t (d_data w)))
-                       | None => is_error a
-                       end
-           | None => is_error a
-           end
-         | _ => match a with ARows _ _ | AHist _ _ => want_commit r v t a | _ => true end   (* refusing is fine; rows must be the right ones *)
-         end
-     if revdb_denotes r v then want_commit r v t a
-    else match (norm_base r (fst v), snd v) with
-         | (BBranch b, []) =>                         (* dirty branch: `db/branch` is the branch's working set *)
-           match branch_working r b with
-           | Some w => match assoc t (d_schema w) with
-                       | Some cols => ans_eqb a (ARows cols (rows_of t (d_data w)))
-                       | None => is_error a
-                       end
-           | None => is_error a
-           end
-         | _ => match a with ARows _ _ | AHist _ _ => want_commit r v t a | _ => true end   (* refusing is fine; rows must be the right ones *)
-         end
-     if revdb_denotes r v then want_commit r v t a
-    else match (norm_base r (fst v), snd v) with
-         | (BBranch b, []) =>                         (* dirty branch: `db/branch` is the branch's working set *)
-           match branch_working r b with
-           | Some w => match assoc t (d_schema w) with
-                       | Some cols => ans_eqb a (ARows cols (rows_of t (d_data w)))
-                       | None => is_error a
-                       end
-           | None => is_error a
-           end
-         | _ => match a with ARows _ _ | AHist _ _ => want_commit r v t a | _ => true end   (* refusing is fine; rows must be the right ones *)
-         end
-     if revdb_denotes r v then want_commit r v t a
-    else match (norm_base r (fst v), snd v) with
-         | (BBranch b, []) =>                         (* dirty branch: `db/branch` is the branch's working set *)
-           match branch_working r b with
-           | Some w => match assoc t (d_schema w) with
-                       | Some cols => ans_eqb a (ARows cols (rows_of t (d_data w)))
-                       | None => is_error a
-                       end
-           | None => is_error a
-           end
-         | _ => match a with ARows _ _ | AHist _ _ => want_commit r v t a | _ => true end   (* refusing is fine; rows must be the right ones *)
-         end
-e    if revdb_denotes r v then want_commit r v t a
-    else match (norm_base r (fst v), snd v) with
-         | (BBranch b, []) =>                         (* dirty branch: `db/branch` is the branch's working set *)
-           match branch_working r b with
-           | Some w => match assoc t (d_schema w) with
-                       | Some cols => ans_eqb a (ARows cols (rows_of t (d_data w)))
-                       | None => is_error a
-                       end
-           | None => is_error a
-           end
-         | _ => match a with ARows _ _ | AHist _ _ => want_commit r v t a | _ => true end   (* refusing is fine; rows must be the right ones *)
-         end
-n    if revdb_denotes r v then want_commit r v t a
-    else match (norm_base r (fst v), snd v) with
-         | (BBranch b, []) =>                         (* dirty branch: `db/branch` is the branch's working set *)
-           match branch_working r b with
-           | Some w => match assoc t (d_schema w) with
-                       | Some cols => ans_eqb a (ARows cols (rows_of t (d_data w)))
-                       | None => is_error a
-                       end
-           | None => is_error a
-           end
-         | _ => match a with ARows _ _ | AHist _ _ => want_commit r v t a | _ => true end   (* refusing is fine; rows must be the right ones *)
-         end
-d    if revdb_denotes r v then want_commit r v t a
-    else match (norm_base r (fst v), snd v) with
-         | (BBranch b, []) =>                         (* dirty branch: `db/branch` is the branch's working set *)
-           match branch_working r b with
-           | Some w => match assoc t (d_schema w) with
-                       | Some cols => ans_eqb a (ARows cols (rows_of t (d_data w)))
-                       | None => is_error a
-                       end
-           | None => is_error a
-           end
-         | _ => match a with ARows _ _ | AHist _ _ => want_commit r v t a | _ => true end   (* refusing is fine; rows must be the right ones *)
-         end
-
-    if revdb_denotes r v then want_commit r v t a
-    else match (norm_base r (fst v), snd v) with
-         | (BBranch b, []) =>                         (* dirty branch: `db/branch` is the branch's working set *)
-           match branch_working r b with
-           | Some w => match assoc t (d_schema w) with
-                       | Some cols => ans_eqb a (ARows cols (rows_of t (d_data w)))
-                       | None => is_error a
-                       end
-           | None => is_error a
-           end
-         | _ => match a with ARows _ _ | AHist _ _ => want_commit r v t a | _ => true end   (* refusing is fine; rows must be the right ones *)
-         end
-     if revdb_denotes r v then want_commit r v t a
-    else match (norm_base r (fst v), snd v) with
-         | (BBranch b, []) =>                         (* dirty branch: `db/branch` is the branch's working set *)
-           match branch_working r b with
-           | Some w => match assoc t (d_schema w) with
-                       | Some cols => ans_eqb a (ARows cols (rows_of t (d_data w)))
-                       | None => is_error a
-                       end
-           | None => is_error a
-           end
-         | _ => match a with ARows _ _ | AHist _ _ => want_commit r v t a | _ => true end   (* refusing is fine; rows must be the right ones *)
-         end
-     if revdb_denotes r v then want_commit r v t a
-    else match (norm_base r (fst v), snd v) with
-         | (BBranch b, []) =>                         (* dirty branch: `db/branch` is the branch's working set *)
-           match branch_working r b with
-           | Some w => match assoc t (d_schema w) with
-                       | Some cols => ans_eqb a (ARows cols (rows_of t (d_data w)))
-                       | None => is_error a
-                       end
-           | None => is_error a
-           end
-         | _ => match a with ARows _ _ | AHist _ _ => want_commit r v t a | _ => true end   (* refusing is fine; rows must be the right ones *)
-         end
-     if revdb_denotes r v then want_commit r v t a
-    else match (norm_base r (fst v), snd v) with
-         | (BBranch b, []) =>                         (* dirty branch: `db/branch` is the branch's working set *)
-           match branch_working r b with
-           | Some w => match assoc t (d_schema w) with
-                       | Some cols => ans_eqb a (ARows cols (rows_of t (d_data w)))
-                       | None => is_error a
-                       end
-           | None => is_error a
-           end
-         | _ => match a with ARows _ _ | AHist _ _ => want_commit r v t a | _ => true end   (* refusing is fine; rows must be the right ones *)
-         end
-     if revdb_denotes r v then want_commit r v t a
-    else match (norm_base r (fst v), snd v) with
-         | (BBranch b, []) =>                         (* dirty branch: `db/branch` is the branch's working set *)
-           match branch_working r b with
-           | Some w => match assoc t (d_schema w) with
-                       | Some cols => ans_eqb a (ARows cols (rows_of t (d_data w)))
-                       | None => is_error a
-                       end
-           | None => is_error a
-           end
-         | _ => match a with ARows _ _ | AHist _ _ => want_commit r v t a | _ => true end   (* refusing is fine; rows must be the right ones *)
-         end
-     if revdb_denotes r v then want_commit r v t a
-    else match (norm_base r (fst v), snd v) with
-         | (BBranch b, []) =>                         (* dirty branch: `db/branch` is the branch's working set *)
-           match branch_working r b with
-           | Some w => match assoc t (d_schema w) with
-                       | Some cols => ans_eqb a (ARows cols (rows_of t (d_data w)))
-                       | None => is_error a
-                       end
-           | None => is_error a
-           end
-         | _ => match a with ARows _ _ | AHist _ _ => want_commit r v t a | _ => true end   (* refusing is fine; rows must be the right ones *)
-         end
-     if revdb_denotes r v then want_commit r v t a
-    else match (norm_base r (fst v), snd v) with
-         | (BBranch b, []) =>                         (* dirty branch: `db/branch` is the branch's working set *)
-           match branch_working r b with
-           | Some w => match assoc t (d_schema w) with
-                       | Some cols => ans_eqb a (ARows cols (rows_of t (d_data w)))
-                       | None => is_error a
-                       end
-           | None => is_error a
-           end
-         | _ => match a with ARows _ _ | AHist _ _ => want_commit r v t a | _ => true end   (* refusing is fine; rows must be the right ones *)
-         end
-     if revdb_denotes r v then want_commit r v t a
-    else match (norm_base r (fst v), snd v) with
-         | (BBranch b, []) =>                         (* dirty branch: `db/branch` is the branch's working set *)
-           match branch_working r b with
-           | Some w => match assoc t (d_schema w) with
-                       | Some cols => ans_eqb a (ARows cols (rows_of t (d_data w)))
-                       | None => is_error a
-                       end
-           | None => is_error a
-           end
-         | _ => match a with ARows _ _ | AHist _ _ => want_commit r v t a | _ => true end   (* refusing is fine; rows must be the right ones *)
-         end
-     if revdb_denotes r v then want_commit r v t a
-    else match (norm_base r (fst v), snd v) with
-         | (BBranch b, []) =>                         (* dirty branch: `db/branch` is the branch's working set *)
-           match branch_working r b with
-           | Some w => match assoc t (d_schema w) with
-                       | Some cols => ans_eqb a (ARows cols (rows_of t (d_data w)))
-                       | None => is_error a
-                       end
-           | None => is_error a
-           end
-         | _ => match a with ARows _ _ | AHist _ _ => want_commit r v t a | _ => true end   (* refusing is fine; rows must be the right ones *)
-         end
-     if revdb_denotes r v then want_commit r v t a
-    else match (norm_base r (fst v), snd v) with
-         | (BBranch b, []) =>                         (* dirty branch: `db/branch` is the branch's working set *)
-           match branch_working r b with
-           | Some w => match assoc t (d_schema w) with
-                       | Some cols => ans_eqb a (ARows cols (rows_of t (d_data w)))
-                       | None => is_error a
-                       end
-           | None => is_error a
-           end
-         | _ => match a with ARows _ _ | AHist _ _ => want_commit r v t a | _ => true end   (* refusing is fine; rows must be the right ones *)
-         end
-     if revdb_denotes r v then want_commit r v t a
-    else match (norm_base r (fst v), snd v) with
-         | (BBranch b, []) =>                         (* dirty branch: `db/branch` is the branch's working set *)
-           match branch_working r b with
-           | Some w => match assoc t (d_schema w) with
-                       | Some cols => ans_eqb a (ARows cols (rows_of t (d_data w)))
-                       | None => is_error a
-                       end
-           | None => is_error a
-           end
-         | _ => match a with ARows _ _ | AHist _ _ => want_commit r v t a | _ => true end   (* refusing is fine; rows must be the right ones *)
-         end
-     if revdb_denotes r v then want_commit r v t a
-    else match (norm_base r (fst v), snd v) with
-         | (BBranch b, []) =>                         (* dirty branch: `db/branch` is the branch's working set *)
-           match branch_working r b with
-           | Some w => match assoc t (d_schema w) with
-                       | Some cols => ans_eqb a (ARows cols (rows_of t (d_data w)))
-                       | None => is_error a
-                       end
-           | None => is_error a
-           end
-         | _ => match a with ARows _ _ | AHist _ _ => want_commit r v t a | _ => true end   (* refusing is fine; rows must be the right ones *)
-         end
-     if revdb_denotes r v then want_commit r v t a
-    else match (norm_base r (fst v), snd v) with
-         | (BBranch b, []) =>                         (* dirty branch: `db/branch` is the branch's working set *)
-           match branch_working r b with
-           | Some w => match assoc t (d_schema w) with
-                       | Some cols => ans_eqb a (ARows cols (rows_of t (d_data w)))
-                       | None => is_error a
-                       end
-           | None => is_error a
-           end
-         | _ => match a with ARows _ _ | AHist _ _ => want_commit r v t a | _ => true end   (* refusing is fine; rows must be the right ones *)
-         end
-     if revdb_denotes r v then want_commit r v t a
-    else match (norm_base r (fst v), snd v) with
-         | (BBranch b, []) =>                         (* dirty branch: `db/branch` is the branch's working set *)
-           match branch_working r b with
-           | Some w => match assoc t (d_schema w) with
-                       | Some cols => ans_eqb a (ARows cols (rows_of t (d_data w)))
-                       | None => is_error a
-                       end
-           | None => is_error a
-           end
-         | _ => match a with ARows _ _ | AHist _ _ => want_commit r v t a | _ => true end   (* refusing is fine; rows must be the right ones *)
-         end
-     if revdb_denotes r v then want_commit r v t a
-    else match (norm_base r (fst v), snd v) with
-         | (BBranch b, []) =>                         (* dirty branch: `db/branch` is the branch's working set *)
-           match branch_working r b with
-           | Some w => match assoc t (d_schema w) with
-                       | Some cols => ans_eqb a (ARows cols (rows_of t (d_data w)))
-                       | None => is_error a
-                       end
-           | None => is_error a
-           end
-         | _ => match a with ARows _ _ | AHist _ _ => want_commit r v t a | _ => true end   (* refusing is fine; rows must be the right ones *)
-         end
-|    if revdb_denotes r v then want_commit r v t a
-    else match (norm_base r (fst v), snd v) with
-         | (BBranch b, []) =>                         (* dirty branch: `db/branch` is the branch's working set *)
-           match branch_working r b with
-           | Some w => match assoc t (d_schema w) with
-                       | Some cols => ans_eqb a (ARows cols (rows_of t (d_data w)))
-                       | None => is_error a
-                       end
-           | None => is_error a
-           end
-         | _ => match a with ARows _ _ | AHist _ _ => want_commit r v t a | _ => true end   (* refusing is fine; rows must be the right ones *)
-         end
-     if revdb_denotes r v then want_commit r v t a
-    else match (norm_base r (fst v), snd v) with
-         | (BBranch b, []) =>                         (* dirty branch: `db/branch` is the branch's working set *)
-           match branch_working r b with
-           | Some w => match assoc t (d_schema w) with
-                       | Some cols => ans_eqb a (ARows cols (rows_of t (d_data w)))
-                       | None => is_error a
-                       end
-           | None => is_error a
-           end
-         | _ => match a with ARows _ _ | AHist _ _ => want_commit r v t a | _ => true end   (* refusing is fine; rows must be the right ones *)
-         end
-N    if revdb_denotes r v then want_commit r v t a
-    else match (norm_base r (fst v), snd v) with
-         | (BBranch b, []) =>                         (* dirty branch: `db/branch` is the branch's working set *)
-           match branch_working r b with
-           | Some w => match assoc t (d_schema w) with
-                       | Some cols => ans_eqb a (ARows cols (rows_of t (d_data w)))
-                       | None => is_error a
-                       end
-           | None => is_error a
-           end
-         | _ => match a with ARows _ _ | AHist _ _ => want_commit r v t a | _ => true end   (* refusing is fine; rows must be the right ones *)
-         end
-o    if revdb_denotes r v then want_commit r v t a
-    else match (norm_base r (fst v), snd v) with
-         | (BBranch b, []) =>                         (* dirty branch: `db/branch` is the branch's working set *)
-           match branch_working r b with
-           | Some w => match assoc t (d_schema w) with
-                       | Some cols => ans_eqb a (ARows cols (rows_of t (d_data w)))
-                       | None => is_error a
-                       end
-           | None => is_error a
-           end
-         | _ => match a with ARows _ _ | AHist _ _ => want_commit r v t a | _ => true end   (* refusing is fine; rows must be the right ones *)
-         end
-n    if revdb_denotes r v then want_commit r v t a
-    else match (norm_base r (fst v), snd v) with
-         | (BBranch b, []) =>                         (* dirty branch: `db/branch` is the branch's working set *)
-           match branch_working r b with
-           | Some w => match assoc t (d_schema w) with
-                       | Some cols => ans_eqb a (ARows cols (rows_of t (d_data w)))
-                       | None => is_error a
-                       end
-           | None => is_error a
-           end
-         | _ => match a with ARows _ _ | AHist _ _ => want_commit r v t a | _ => true end   (* refusing is fine; rows must be the right ones *)
-         end
-e    if revdb_denotes r v then want_commit r v t a
-    else match (norm_base r (fst v), snd v) with
-         | (BBranch b, []) =>                         (* dirty branch: `db/branch` is the branch's working set *)
-           match branch_working r b with
-           | Some w => match assoc t (d_schema w) with
-                       | Some cols => ans_eqb a (ARows cols (rows_of t (d_data w)))
-                       | None => is_error a
-                       end
-           | None => is_error a
-           end
-         | _ => match a with ARows _ _ | AHist _ _ => want_commit r v t a | _ => true end   (* refusing is fine; rows must be the right ones *)
-         end
-     if revdb_denotes r v then want_commit r v t a
-    else match (norm_base r (fst v), snd v) with
-         | (BBranch b, []) =>                         (* dirty branch: `db/branch` is the branch's working set *)
-           match branch_working r b with
-           | Some w => match assoc t (d_schema w) with
-                       | Some cols => ans_eqb a (ARows cols (rows_of t (d_data w)))
-                       | None => is_error a
-                       end
-           | None => is_error a
-           end
-         | _ => match a with ARows _ _ | AHist _ _ => want_commit r v t a | _ => true end   (* refusing is fine; rows must be the right ones *)
-         end
-=    if revdb_denotes r v then want_commit r v t a
-    else match (norm_base r (fst v), snd v) with
-         | (BBranch b, []) =>                         (* dirty branch: `db/branch` is the branch's working set *)
-           match branch_working r b with
-           | Some w => match assoc t (d_schema w) with
-                       | Some cols => ans_eqb a (ARows cols (rows_of t (d_data w)))
-                       | None => is_error a
-                       end
-           | None => is_error a
-           end
-         | _ => match a with ARows _ _ | AHist _ _ => want_commit r v t a | _ => true end   (* refusing is fine; rows must be the right ones *)
-         end
->    if revdb_denotes r v then want_commit r v t a
-    else match (norm_base r (fst v), snd v) with
-         | (BBranch b, []) =>                         (* dirty branch: `db/branch` is the branch's working set *)
-           match branch_working r b with
-           | Some w => match assoc t (d_schema w) with
-                       | Some cols => ans_eqb a (ARows cols (rows_of t (d_data w)))
-                       | None => is_error a
-                       end
-           | None => is_error a
-           end
-         | _ => match a with ARows _ _ | AHist _ _ => want_commit r v t a | _ => true end   (* refusing is fine; rows must be the right ones *)
-         end
-     if revdb_denotes r v then want_commit r v t a
-    else match (norm_base r (fst v), snd v) with
-         | (BBranch b, []) =>                         (* dirty branch: `db/branch` is the branch's working set *)
-           match branch_working r b with
-           | Some w => match assoc t (d_schema w) with
-                       | Some cols => ans_eqb a (ARows cols (rows_of t (d_data w)))
-                       | None => is_error a
-                       end
-           | None => is_error a
-           end
-         | _ => match a with ARows _ _ | AHist _ _ => want_commit r v t a | _ => true end   (* refusing is fine; rows must be the right ones *)
-         end
-i    if revdb_denotes r v then want_commit r v t a
-    else match (norm_base r (fst v), snd v) with
-         | (BBranch b, []) =>                         (* dirty branch: `db/branch` is the branch's working set *)
-           match branch_working r b with
-           | Some w => match assoc t (d_schema w) with
-                       | Some cols => ans_eqb a (ARows cols (rows_of t (d_data w)))
-                       | None => is_error a
-                       end
-           | None => is_error a
-           end
-         | _ => match a with ARows _ _ | AHist _ _ => want_commit r v t a | _ => true end   (* refusing is fine; rows must be the right ones *)
-         end
-s    if revdb_denotes r v then want_commit r v t a
-    else match (norm_base r (fst v), snd v) with
-         | (BBranch b, []) =>                         (* dirty branch: `db/branch` is the branch's working set *)
-           match branch_working r b with
-           | Some w => match assoc t (d_schema w) with
-                       | Some cols => ans_eqb a (ARows cols (rows_of t (d_data w)))
-                       | None => is_error a
-                       end
-           | None => is_error a
-           end
-         | _ => match a with ARows _ _ | AHist _ _ => want_commit r v t a | _ => true end   (* refusing is fine; rows must be the right ones *)
-         end
-_    if revdb_denotes r v then want_commit r v t a
-    else match (norm_base r (fst v), snd v) with
-         | (BBranch b, []) =>                         (* dirty branch: `db/branch` is the branch's working set *)
-           match branch_working r b with
-           | Some w => match assoc t (d_schema w) with
-                       | Some cols => ans_eqb a (ARows cols (rows_of t (d_data w)))
-                       | None => is_error a
-                       end
-           | None => is_error a
-           end
-         | _ => match a with ARows _ _ | AHist _ _ => want_commit r v t a | _ => true end   (* refusing is fine; rows must be the right ones *)
-         end
-e    if revdb_denotes r v then want_commit r v t a
-    else match (norm_base r (fst v), snd v) with
-         | (BBranch b, []) =>                         (* dirty branch: `db/branch` is the branch's working set *)
-           match branch_working r b with
-           | Some w => match assoc t (d_schema w) with
-                       | Some cols => ans_eqb a (ARows cols (rows_of t (d_data w)))
-                       | None => is_error a
-                       end
-           | None => is_error a
-           end
-         | _ => match a with ARows _ _ | AHist _ _ => want_commit r v t a | _ => true end   (* refusing is fine; rows must be the right ones *)
-         end
-r    if revdb_denotes r v then want_commit r v t a
-    else match (norm_base r (fst v), snd v) with
-         | (BBranch b, []) =>                         (* dirty branch: `db/branch` is the branch's working set *)
-           match branch_working r b with
-           | Some w => match assoc t (d_schema w) with
-                       | Some cols => ans_eqb a (ARows cols (rows_of t (d_data w)))
-                       | None => is_error a
-                       end
-           | None => is_error a
-           end
-         | _ => match a with ARows _ _ | AHist _ _ => want_commit r v t a | _ => true end   (* refusing is fine; rows must be the right ones *)
-         end
-r    if revdb_denotes r v then want_commit r v t a
-    else match (norm_base r (fst v), snd v) with
-         | (BBranch b, []) =>                         (* dirty branch: `db/branch` is the branch's working set *)
-           match branch_working r b with
-           | Some w => match assoc t (d_schema w) with
-                       | Some cols => ans_eqb a (ARows cols (rows_of t (d_data w)))
-                       | None => is_error a
-                       end
-           | None => is_error a
-           end
-         | _ => match a with ARows _ _ | AHist _ _ => want_commit r v t a | _ => true end   (* refusing is fine; rows must be the right ones *)
-         end
-o    if revdb_denotes r v then want_commit r v t a
-    else match (norm_base r (fst v), snd v) with
-         | (BBranch b, []) =>                         (* dirty branch: `db/branch` is the branch's working set *)
-           match branch_working r b with
-           | Some w => match assoc t (d_schema w) with
-                       | Some cols => ans_eqb a (ARows cols (rows_of t (d_data w)))
-                       | None => is_error a
-                       end
-           | None => is_error a
-           end
-         | _ => match a with ARows _ _ | AHist _ _ => want_commit r v t a | _ => true end   (* refusing is fine; rows must be the right ones *)
-         end
-r    if revdb_denotes r v then want_commit r v t a
-    else match (norm_base r (fst v), snd v) with
-         | (BBranch b, []) =>                         (* dirty branch: `db/branch` is the branch's working set *)
-           match branch_working r b with
-           | Some w => match assoc t (d_schema w) with
-                       | Some cols => ans_eqb a (ARows cols (rows_of t (d_data w)))
-                       | None => is_error a
-                       end
-           | None => is_error a
-           end
-         | _ => match a with ARows _ _ | AHist _ _ => want_commit r v t a | _ => true end   (* refusing is fine; rows must be the right ones *)
-         end
-     if revdb_denotes r v then want_commit r v t a
-    else match (norm_base r (fst v), snd v) with
-         | (BBranch b, []) =>                         (* dirty branch: `db/branch` is the branch's working set *)
-           match branch_working r b with
-           | Some w => match assoc t (d_schema w) with
-                       | Some cols => ans_eqb a (ARows cols (rows_of t (d_data w)))
-                       | None => is_error a
-                       end
-           | None => is_error a
-           end
-         | _ => match a with ARows _ _ | AHist _ _ => want_commit r v t a | _ => true end   (* refusing is fine; rows must be the right ones *)
-         end
-a    if revdb_denotes r v then want_commit r v t a
-    else match (norm_base r (fst v), snd v) with
-         | (BBranch b, []) =>                         (* dirty branch: `db/branch` is the branch's working set *)
-           match branch_working r b with
-           | Some w => match assoc t (d_schema w) with
-                       | Some cols => ans_eqb a (ARows cols (rows_of t (d_data w)))
-                       | None => is_error a
-                       end
-           | None => is_error a
-           end
-         | _ => match a with ARows _ _ | AHist _ _ => want_commit r v t a | _ => true end   (* refusing is fine; rows must be the right ones *)
-         end
-
-    if revdb_denotes r v then want_commit r v t a
-    else match (norm_base r (fst v), snd v) with
-         | (BBranch b, []) =>                         (* dirty branch: `db/branch` is the branch's working set *)
-           match branch_working r b with
-           | Some w => match assoc t (d_schema w) with
-                       | Some cols => ans_eqb a (ARows cols (rows_of t (d_data w)))
-                       | None => is_error a
-                       end
-           | None => is_error a
-           end
-         | _ => match a with ARows _ _ | AHist _ _ => want_commit r v t a | _ => true end   (* refusing is fine; rows must be the right ones *)
-         end
-     if revdb_denotes r v then want_commit r v t a
-    else match (norm_base r (fst v), snd v) with
-         | (BBranch b, []) =>                         (* dirty branch: `db/branch` is the branch's working set *)
-           match branch_working r b with
-           | Some w => match assoc t (d_schema w) with
-                       | Some cols => ans_eqb a (ARows cols (rows_of t (d_data w)))
-                       | None => is_error a
-                       end
-           | None => is_error a
-           end
-         | _ => match a with ARows _ _ | AHist _ _ => want_commit r v t a | _ => true end   (* refusing is fine; rows must be the right ones *)
-         end
-     if revdb_denotes r v then want_commit r v t a
-    else match (norm_base r (fst v), snd v) with
-         | (BBranch b, []) =>                         (* dirty branch: `db/branch` is the branch's working set *)
-           match branch_working r b with
-           | Some w => match assoc t (d_schema w) with
-                       | Some cols => ans_eqb a (ARows cols (rows_of t (d_data w)))
-                       | None => is_error a
-                       end
-           | None => is_error a
-           end
-         | _ => match a with ARows _ _ | AHist _ _ => want_commit r v t a | _ => true end   (* refusing is fine; rows must be the right ones *)
-         end
-     if revdb_denotes r v then want_commit r v t a
-    else match (norm_base r (fst v), snd v) with
-         | (BBranch b, []) =>                         (* dirty branch: `db/branch` is the branch's working set *)
-           match branch_working r b with
-           | Some w => match assoc t (d_schema w) with
-                       | Some cols => ans_eqb a (ARows cols (rows_of t (d_data w)))
-                       | None => is_error a
-                       end
-           | None => is_error a
-           end
-         | _ => match a with ARows _ _ | AHist _ _ => want_commit r v t a | _ => true end   (* refusing is fine; rows must be the right ones *)
-         end
-     if revdb_denotes r v then want_commit r v t a
-    else match (norm_base r (fst v), snd v) with
-         | (BBranch b, []) =>                         (* dirty branch: `db/branch` is the branch's working set *)
-           match branch_working r b with
-           | Some w => match assoc t (d_schema w) with
-                       | Some cols => ans_eqb a (ARows cols (rows_of t (d_data w)))
-                       | None => is_error a
-                       end
-           | None => is_error a
-           end
-         | _ => match a with ARows _ _ | AHist _ _ => want_commit r v t a | _ => true end   (* refusing is fine; rows must be the right ones *)
-         end
-     if revdb_denotes r v then want_commit r v t a
-    else match (norm_base r (fst v), snd v) with
-         | (BBranch b, []) =>                         (* dirty branch: `db/branch` is the branch's working set *)
-           match branch_working r b with
-           | Some w => match assoc t (d_schema w) with
-                       | Some cols => ans_eqb a (ARows cols (rows_of t (d_data w)))
-                       | None => is_error a
-                       end
-           | None => is_error a
-           end
-         | _ => match a with ARows _ _ | AHist _ _ => want_commit r v t a | _ => true end   (* refusing is fine; rows must be the right ones *)
-         end
-     if revdb_denotes r v then want_commit r v t a
-    else match (norm_base r (fst v), snd v) with
-         | (BBranch b, []) =>                         (* dirty branch: `db/branch` is the branch's working set *)
-           match branch_working r b with
-           | Some w => match assoc t (d_schema w) with
-                       | Some cols => ans_eqb a (ARows cols (rows_of t (d_data w)))
-                       | None => is_error a
-                       end
-           | None => is_error a
-           end
-         | _ => match a with ARows _ _ | AHist _ _ => want_commit r v t a | _ => true end   (* refusing is fine; rows must be the right ones *)
-         end
-     if revdb_denotes r v then want_commit r v t a
-    else match (norm_base r (fst v), snd v) with
-         | (BBranch b, []) =>                         (* dirty branch: `db/branch` is the branch's working set *)
-           match branch_working r b with
-           | Some w => match assoc t (d_schema w) with
-                       | Some cols => ans_eqb a (ARows cols (rows_of t (d_data w)))
-                       | None => is_error a
-                       end
-           | None => is_error a
-           end
-         | _ => match a with ARows _ _ | AHist _ _ => want_commit r v t a | _ => true end   (* refusing is fine; rows must be the right ones *)
-         end
-     if revdb_denotes r v then want_commit r v t a
-    else match (norm_base r (fst v), snd v) with
-         | (BBranch b, []) =>                         (* dirty branch: `db/branch` is the branch's working set *)
-           match branch_working r b with
-           | Some w => match assoc t (d_schema w) with
-                       | Some cols => ans_eqb a (ARows cols (rows_of t (d_data w)))
-                       | None => is_error a
-                       end
-           | None => is_error a
-           end
-         | _ => match a with ARows _ _ | AHist _ _ => want_commit r v t a | _ => true end   (* refusing is fine; rows must be the right ones *)
-         end
-     if revdb_denotes r v then want_commit r v t a
-    else match (norm_base r (fst v), snd v) with
-         | (BBranch b, []) =>                         (* dirty branch: `db/branch` is the branch's working set *)
-           match branch_working r b with
-           | Some w => match assoc t (d_schema w) with
-                       | Some cols => ans_eqb a (ARows cols (rows_of t (d_data w)))
-                       | None => is_error a
-                       end
-           | None => is_error a
-           end
-         | _ => match a with ARows _ _ | AHist _ _ => want_commit r v t a | _ => true end   (* refusing is fine; rows must be the right ones *)
-         end
-     if revdb_denotes r v then want_commit r v t a
-    else match (norm_base r (fst v), snd v) with
-         | (BBranch b, []) =>                         (* dirty branch: `db/branch` is the branch's working set *)
-           match branch_working r b with
-           | Some w => match assoc t (d_schema w) with
-                       | Some cols => ans_eqb a (ARows cols (rows_of t (d_data w)))
-                       | None => is_error a
-                       end
-           | None => is_error a
-           end
-         | _ => match a with ARows _ _ | AHist _ _ => want_commit r v t a | _ => true end   (* refusing is fine; rows must be the right ones *)
-         end
-     if revdb_denotes r v then want_commit r v t a
-    else match (norm_base r (fst v), snd v) with
-         | (BBranch b, []) =>                         (* dirty branch: `db/branch` is the branch's working set *)
-           match branch_working r b with
-           | Some w => match assoc t (d_schema w) with
-                       | Some cols => ans_eqb a (ARows cols (rows_of t (d_data w)))
-                       | None => is_error a
-                       end
-           | None => is_error a
-           end
-         | _ => match a with ARows _ _ | AHist _ _ => want_commit r v t a | _ => true end   (* refusing is fine; rows must be the right ones *)
-         end
-     if revdb_denotes r v then want_commit r v t a
-    else match (norm_base r (fst v), snd v) with
-         | (BBranch b, []) =>                         (* dirty branch: `db/branch` is the branch's working set *)
-           match branch_working r b with
-           | Some w => match assoc t (d_schema w) with
-                       | Some cols => ans_eqb a (ARows cols (rows_of t (d_data w)))
-                       | None => is_error a
-                       end
-           | None => is_error a
-           end
-         | _ => match a with ARows _ _ | AHist _ _ => want_commit r v t a | _ => true end   (* refusing is fine; rows must be the right ones *)
-         end
-     if revdb_denotes r v then want_commit r v t a
-    else match (norm_base r (fst v), snd v) with
-         | (BBranch b, []) =>                         (* dirty branch: `db/branch` is the branch's working set *)
-           match branch_working r b with
-           | Some w => match assoc t (d_schema w) with
-                       | Some cols => ans_eqb a (ARows cols (rows_of t (d_data w)))
-                       | None => is_error a
-                       end
-           | None => is_error a
-           end
-         | _ => match a with ARows _ _ | AHist _ _ => want_commit r v t a | _ => true end   (* refusing is fine; rows must be the right ones *)
-         end
-     if revdb_denotes r v then want_commit r v t a
-    else match (norm_base r (fst v), snd v) with
-         | (BBranch b, []) =>                         (* dirty branch: `db/branch` is the branch's working set *)
-           match branch_working r b with
-           | Some w => match assoc t (d_schema w) with
-                       | Some cols => ans_eqb a (ARows cols (rows_of t (d_data w)))
-                       | None => is_error a
-                       end
-           | None => is_error a
-           end
-         | _ => match a with ARows _ _ | AHist _ _ => want_commit r v t a | _ => true end   (* refusing is fine; rows must be the right ones *)
-         end
-e    if revdb_denotes r v then want_commit r v t a
-    else match (norm_base r (fst v), snd v) with
-         | (BBranch b, []) =>                         (* dirty branch: `db/branch` is the branch's working set *)
-           match branch_working r b with
-           | Some w => match assoc t (d_schema w) with
-                       | Some cols => ans_eqb a (ARows cols (rows_of t (d_data w)))
-                       | None => is_error a
-                       end
-           | None => is_error a
-           end
-         | _ => match a with ARows _ _ | AHist _ _ => want_commit r v t a | _ => true end   (* refusing is fine; rows must be the right ones *)
-         end
-n    if revdb_denotes r v then want_commit r v t a
-    else match (norm_base r (fst v), snd v) with
-         | (BBranch b, []) =>                         (* dirty branch: `db/branch` is the branch's working set *)
-           match branch_working r b with
-           | Some w => match assoc t (d_schema w) with
-                       | Some cols => ans_eqb a (ARows cols (rows_of t (d_data w)))
-                       | None => is_error a
-                       end
-           | None => is_error a
-           end
-         | _ => match a with ARows _ _ | AHist _ _ => want_commit r v t a | _ => true end   (* refusing is fine; rows must be the right ones *)
-         end
-d    if revdb_denotes r v then want_commit r v t a
-    else match (norm_base r (fst v), snd v) with
-         | (BBranch b, []) =>                         (* dirty branch: `db/branch` is the branch's working set *)
-           match branch_working r b with
-           | Some w => match assoc t (d_schema w) with
-                       | Some cols => ans_eqb a (ARows cols (rows_of t (d_data w)))
-                       | None => is_error a
-                       end
-           | None => is_error a
-           end
-         | _ => match a with ARows _ _ | AHist _ _ => want_commit r v t a | _ => true end   (* refusing is fine; rows must be the right ones *)
-         end
-
-    if revdb_denotes r v then want_commit r v t a
-    else match (norm_base r (fst v), snd v) with
-         | (BBranch b, []) =>                         (* dirty branch: `db/branch` is the branch's working set *)
-           match branch_working r b with
-           | Some w => match assoc t (d_schema w) with
-                       | Some cols => ans_eqb a (ARows cols (rows_of t (d_data w)))
-                       | None => is_error a
-                       end
-           | None => is_error a
-           end
-         | _ => match a with ARows _ _ | AHist _ _ => want_commit r v t a | _ => true end   (* refusing is fine; rows must be the right ones *)
-         end
-     if revdb_denotes r v then want_commit r v t a
-    else match (norm_base r (fst v), snd v) with
-         | (BBranch b, []) =>                         (* dirty branch: `db/branch` is the branch's working set *)
-           match branch_working r b with
-           | Some w => match assoc t (d_schema w) with
-                       | Some cols => ans_eqb a (ARows cols (rows_of t (d_data w)))
-                       | None => is_error a
-                       end
-           | None => is_error a
-           end
-         | _ => match a with ARows _ _ | AHist _ _ => want_commit r v t a | _ => true end   (* refusing is fine; rows must be the right ones *)
-         end
-     if revdb_denotes r v then want_commit r v t a
-    else match (norm_base r (fst v), snd v) with
-         | (BBranch b, []) =>                         (* dirty branch: `db/branch` is the branch's working set *)
-           match branch_working r b with
-           | Some w => match assoc t (d_schema w) with
-                       | Some cols => ans_eqb a (ARows cols (rows_of t (d_data w)))
-                       | None => is_error a
-                       end
-           | None => is_error a
-           end
-         | _ => match a with ARows _ _ | AHist _ _ => want_commit r v t a | _ => true end   (* refusing is fine; rows must be the right ones *)
-         end
-|    if revdb_denotes r v then want_commit r v t a
-    else match (norm_base r (fst v), snd v) with
-         | (BBranch b, []) =>                         (* dirty branch: `db/branch` is the branch's working set *)
-           match branch_working r b with
-           | Some w => match assoc t (d_schema w) with
-                       | Some cols => ans_eqb a (ARows cols (rows_of t (d_data w)))
-                       | None => is_error a
-                       end
-           | None => is_error a
-           end
-         | _ => match a with ARows _ _ | AHist _ _ => want_commit r v t a | _ => true end   (* refusing is fine; rows must be the right ones *)
-         end
-     if revdb_denotes r v then want_commit r v t a
-    else match (norm_base r (fst v), snd v) with
-         | (BBranch b, []) =>                         (* dirty branch: `db/branch` is the branch's working set *)
-           match branch_working r b with
-           | Some w => match assoc t (d_schema w) with
-                       | Some cols => ans_eqb a (ARows cols (rows_of t (d_data w)))
-                       | None => is_error a
-                       end
-           | None => is_error a
-           end
-         | _ => match a with ARows _ _ | AHist _ _ => want_commit r v t a | _ => true end   (* refusing is fine; rows must be the right ones *)
-         end
-N    if revdb_denotes r v then want_commit r v t a
-    else match (norm_base r (fst v), snd v) with
-         | (BBranch b, []) =>                         (* dirty branch: `db/branch` is the branch's working set *)
-           match branch_working r b with
-           | Some w => match assoc t (d_schema w) with
-                       | Some cols => ans_eqb a (ARows cols (rows_of t (d_data w)))
-                       | None => is_error a
-                       end
-           | None => is_error a
-           end
-         | _ => match a with ARows _ _ | AHist _ _ => want_commit r v t a | _ => true end   (* refusing is fine; rows must be the right ones *)
-         end
-o    if revdb_denotes r v then want_commit r v t a
-    else match (norm_base r (fst v), snd v) with
-         | (BBranch b, []) =>                         (* dirty branch: `db/branch` is the branch's working set *)
-           match branch_working r b with
-           | Some w => match assoc t (d_schema w) with
-                       | Some cols => ans_eqb a (ARows cols (rows_of t (d_data w)))
-                       | None => is_error a
-                       end
-           | None => is_error a
-           end
-         | _ => match a with ARows _ _ | AHist _ _ => want_commit r v t a | _ => true end   (* refusing is fine; rows must be the right ones *)
-         end
-n    if revdb_denotes r v then want_commit r v t a
-    else match (norm_base r (fst v), snd v) with
-         | (BBranch b, []) =>                         (* dirty branch: `db/branch` is the branch's working set *)
-           match branch_working r b with
-           | Some w => match assoc t (d_schema w) with
-                       | Some cols => ans_eqb a (ARows cols (rows_of t (d_data w)))
-                       | None => is_error a
-                       end
-           | None => is_error a
-           end
-         | _ => match a with ARows _ _ | AHist _ _ => want_commit r v t a | _ => true end   (* refusing is fine; rows must be the right ones *)
-         end
-e    if revdb_denotes r v then want_commit r v t a
-    else match (norm_base r (fst v), snd v) with
-         | (BBranch b, []) =>                         (* dirty branch: `db/branch` is the branch's working set *)
-           match branch_working r b with
-           | Some w => match assoc t (d_schema w) with
-                       | Some cols => ans_eqb a (ARows cols (rows_of t (d_data w)))
-                       | None => is_error a
-                       end
-           | None => is_error a
-           end
-         | _ => match a with ARows _ _ | AHist _ _ => want_commit r v t a | _ => true end   (* refusing is fine; rows must be the right ones *)
-         end
-     if revdb_denotes r v then want_commit r v t a
-    else match (norm_base r (fst v), snd v) with
-         | (BBranch b, []) =>                         (* dirty branch: `db/branch` is the branch's working set *)
-           match branch_working r b with
-           | Some w => match assoc t (d_schema w) with
-                       | Some cols => ans_eqb a (ARows cols (rows_of t (d_data w)))
-                       | None => is_error a
-                       end
-           | None => is_error a
-           end
-         | _ => match a with ARows _ _ | AHist _ _ => want_commit r v t a | _ => true end   (* refusing is fine; rows must be the right ones *)
-         end
-=    if revdb_denotes r v then want_commit r v t a
-    else match (norm_base r (fst v), snd v) with
-         | (BBranch b, []) =>                         (* dirty branch: `db/branch` is the branch's working set *)
-           match branch_working r b with
-           | Some w => match assoc t (d_schema w) with
-                       | Some cols => ans_eqb a (ARows cols (rows_of t (d_data w)))
-                       | None => is_error a
-                       end
-           | None => is_error a
-           end
-         | _ => match a with ARows _ _ | AHist _ _ => want_commit r v t a | _ => true end   (* refusing is fine; rows must be the right ones *)
-         end
->    if revdb_denotes r v then want_commit r v t a
-    else match (norm_base r (fst v), snd v) with
-         | (BBranch b, []) =>                         (* dirty branch: `db/branch` is the branch's working set *)
-           match branch_working r b with
-           | Some w => match assoc t (d_schema w) with
-                       | Some cols => ans_eqb a (ARows cols (rows_of t (d_data w)))
-                       | None => is_error a
-                       end
-           | None => is_error a
-           end
-         | _ => match a with ARows _ _ | AHist _ _ => want_commit r v t a | _ => true end   (* refusing is fine; rows must be the right ones *)
-         end
-     if revdb_denotes r v then want_commit r v t a
-    else match (norm_base r (fst v), snd v) with
-         | (BBranch b, []) =>                         (* dirty branch: `db/branch` is the branch's working set *)
-           match branch_working r b with
-           | Some w => match assoc t (d_schema w) with
-                       | Some cols => ans_eqb a (ARows cols (rows_of t (d_data w)))
-                       | None => is_error a
-                       end
-           | None => is_error a
-           end
-         | _ => match a with ARows _ _ | AHist _ _ => want_commit r v t a | _ => true end   (* refusing is fine; rows must be the right ones *)
-         end
-i    if revdb_denotes r v then want_commit r v t a
-    else match (norm_base r (fst v), snd v) with
-         | (BBranch b, []) =>                         (* dirty branch: `db/branch` is the branch's working set *)
-           match branch_working r b with
-           | Some w => match assoc t (d_schema w) with
-                       | Some cols => ans_eqb a (ARows cols (rows_of t (d_data w)))
-                       | None => is_error a
-                       end
-           | None => is_error a
-           end
-         | _ => match a with ARows _ _ | AHist _ _ => want_commit r v t a | _ => true end   (* refusing is fine; rows must be the right ones *)
-         end
-s    if revdb_denotes r v then want_commit r v t a
-    else match (norm_base r (fst v), snd v) with
-         | (BBranch b, []) =>                         (* dirty branch: `db/branch` is the branch's working set *)
-           match branch_working r b with
-           | Some w => match assoc t (d_schema w) with
-                       | Some cols => ans_eqb a (ARows cols (rows_of t (d_data w)))
-                       | None => is_error a
-                       end
-           | None => is_error a
-           end
-         | _ => match a with ARows _ _ | AHist _ _ => want_commit r v t a | _ => true end   (* refusing is fine; rows must be the right ones *)
-         end
-_    if revdb_denotes r v then want_commit r v t a
-    else match (norm_base r (fst v), snd v) with
-         | (BBranch b, []) =>                         (* dirty branch: `db/branch` is the branch's working set *)
-           match branch_working r b with
-           | Some w => match assoc t (d_schema w) with
-                       | Some cols => ans_eqb a (ARows cols (rows_of t (d_data w)))
-                       | None => is_error a
-                       end
-           | None => is_error a
-           end
-         | _ => match a with ARows _ _ | AHist _ _ => want_commit r v t a | _ => true end   (* refusing is fine; rows must be the right ones *)
-         end
-e    if revdb_denotes r v then want_commit r v t a
-    else match (norm_base r (fst v), snd v) with
-         | (BBranch b, []) =>                         (* dirty branch: `db/branch` is the branch's working set *)
-           match branch_working r b with
-           | Some w => match assoc t (d_schema w) with
-                       | Some cols => ans_eqb a (ARows cols (rows_of t (d_data w)))
-                       | None => is_error a
-                       end
-           | None => is_error a
-           end
-         | _ => match a with ARows _ _ | AHist _ _ => want_commit r v t a | _ => true end   (* refusing is fine; rows must be the right ones *)
-         end
-r    if revdb_denotes r v then want_commit r v t a
-    else match (norm_base r (fst v), snd v) with
-         | (BBranch b, []) =>                         (* dirty branch: `db/branch` is the branch's working set *)
-           match branch_working r b with
-           | Some w => match assoc t (d_schema w) with
-                       | Some cols => ans_eqb a (ARows cols (rows_of t (d_data w)))
-                       | None => is_error a
-                       end
-           | None => is_error a
-           end
-         | _ => match a with ARows _ _ | AHist _ _ => want_commit r v t a | _ => true end   (* refusing is fine; rows must be the right ones *)
-         end
-r    if revdb_denotes r v then want_commit r v t a
-    else match (norm_base r (fst v), snd v) with
-         | (BBranch b, []) =>                         (* dirty branch: `db/branch` is the branch's working set *)
-           match branch_working r b with
-           | Some w => match assoc t (d_schema w) with
-                       | Some cols => ans_eqb a (ARows cols (rows_of t (d_data w)))
-                       | None => is_error a
-                       end
-           | None => is_error a
-           end
-         | _ => match a with ARows _ _ | AHist _ _ => want_commit r v t a | _ => true end   (* refusing is fine; rows must be the right ones *)
-         end
-o    if revdb_denotes r v then want_commit r v t a
-    else match (norm_base r (fst v), snd v) with
-         | (BBranch b, []) =>                         (* dirty branch: `db/branch` is the branch's working set *)
-           match branch_working r b with
-           | Some w => match assoc t (d_schema w) with
-                       | Some cols => ans_eqb a (ARows cols (rows_of t (d_data w)))
-                       | None => is_error a
-                       end
-           | None => is_error a
-           end
-         | _ => match a with ARows _ _ | AHist _ _ => want_commit r v t a | _ => true end   (* refusing is fine; rows must be the right ones *)
-         end
-r    if revdb_denotes r v then want_commit r v t a
-    else match (norm_base r (fst v), snd v) with
-         | (BBranch b, []) =>                         (* dirty branch: `db/branch` is the branch's working set *)
-           match branch_working r b with
-           | Some w => match assoc t (d_schema w) with
-                       | Some cols => ans_eqb a (ARows cols (rows_of t (d_data w)))
-                       | None => is_error a
-                       end
-           | None => is_error a
-           end
-         | _ => match a with ARows _ _ | AHist _ _ => want_commit r v t a | _ => true end   (* refusing is fine; rows must be the right ones *)
-         end
-     if revdb_denotes r v then want_commit r v t a
-    else match (norm_base r (fst v), snd v) with
-         | (BBranch b, []) =>                         (* dirty branch: `db/branch` is the branch's working set *)
-           match branch_working r b with
-           | Some w => match assoc t (d_schema w) with
-                       | Some cols => ans_eqb a (ARows cols (rows_of t (d_data w)))
-                       | None => is_error a
-                       end
-           | None => is_error a
-           end
-         | _ => match a with ARows _ _ | AHist _ _ => want_commit r v t a | _ => true end   (* refusing is fine; rows must be the right ones *)
-         end
-a    if revdb_denotes r v then want_commit r v t a
-    else match (norm_base r (fst v), snd v) with
-         | (BBranch b, []) =>                         (* dirty branch: `db/branch` is the branch's working set *)
-           match branch_working r b with
-           | Some w => match assoc t (d_schema w) with
-                       | Some cols => ans_eqb a (ARows cols (rows_of t (d_data w)))
-                       | None => is_error a
-                       end
-           | None => is_error a
-           end
-         | _ => match a with ARows _ _ | AHist _ _ => want_commit r v t a | _ => true end   (* refusing is fine; rows must be the right ones *)
-         end
-
-    if revdb_denotes r v then want_commit r v t a
-    else match (norm_base r (fst v), snd v) with
-         | (BBranch b, []) =>                         (* dirty branch: `db/branch` is the branch's working set *)
-           match branch_working r b with
-           | Some w => match assoc t (d_schema w) with
-                       | Some cols => ans_eqb a (ARows cols (rows_of t (d_data w)))
-                       | None => is_error a
-                       end
-           | None => is_error a
-           end
-         | _ => match a with ARows _ _ | AHist _ _ => want_commit r v t a | _ => true end   (* refusing is fine; rows must be the right ones *)
-         end
-     if revdb_denotes r v then want_commit r v t a
-    else match (norm_base r (fst v), snd v) with
-         | (BBranch b, []) =>                         (* dirty branch: `db/branch` is the branch's working set *)
-           match branch_working r b with
-           | Some w => match assoc t (d_schema w) with
-                       | Some cols => ans_eqb a (ARows cols (rows_of t (d_data w)))
-                       | None => is_error a
-                       end
-           | None => is_error a
-           end
-         | _ => match a with ARows _ _ | AHist _ _ => want_commit r v t a | _ => true end   (* refusing is fine; rows must be the right ones *)
-         end
-     if revdb_denotes r v then want_commit r v t a
-    else match (norm_base r (fst v), snd v) with
-         | (BBranch b, []) =>                         (* dirty branch: `db/branch` is the branch's working set *)
-           match branch_working r b with
-           | Some w => match assoc t (d_schema w) with
-                       | Some cols => ans_eqb a (ARows cols (rows_of t (d_data w)))
-                       | None => is_error a
-                       end
-           | None => is_error a
-           end
-         | _ => match a with ARows _ _ | AHist _ _ => want_commit r v t a | _ => true end   (* refusing is fine; rows must be the right ones *)
-         end
-e    if revdb_denotes r v then want_commit r v t a
-    else match (norm_base r (fst v), snd v) with
-         | (BBranch b, []) =>                         (* dirty branch: `db/branch` is the branch's working set *)
-           match branch_working r b with
-           | Some w => match assoc t (d_schema w) with
-                       | Some cols => ans_eqb a (ARows cols (rows_of t (d_data w)))
-                       | None => is_error a
-                       end
-           | None => is_error a
-           end
-         | _ => match a with ARows _ _ | AHist _ _ => want_commit r v t a | _ => true end   (* refusing is fine; rows must be the right ones *)
-         end
-n    if revdb_denotes r v then want_commit r v t a
-    else match (norm_base r (fst v), snd v) with
-         | (BBranch b, []) =>                         (* dirty branch: `db/branch` is the branch's working set *)
-           match branch_working r b with
-           | Some w => match assoc t (d_schema w) with
-                       | Some cols => ans_eqb a (ARows cols (rows_of t (d_data w)))
-                       | None => is_error a
-                       end
-           | None => is_error a
-           end
-         | _ => match a with ARows _ _ | AHist _ _ => want_commit r v t a | _ => true end   (* refusing is fine; rows must be the right ones *)
-         end
-d    if revdb_denotes r v then want_commit r v t a
-    else match (norm_base r (fst v), snd v) with
-         | (BBranch b, []) =>                         (* dirty branch: `db/branch` is the branch's working set *)
-           match branch_working r b with
-           | Some w => match assoc t (d_schema w) with
-                       | Some cols => ans_eqb a (ARows cols (rows_of t (d_data w)))
-                       | None => is_error a
-                       end
-           | None => is_error a
-           end
-         | _ => match a with ARows _ _ | AHist _ _ => want_commit r v t a | _ => true end   (* refusing is fine; rows must be the right ones *)
-         end
-.    if revdb_denotes r v then want_commit r v t a
-    else match (norm_base r (fst v), snd v) with
-         | (BBranch b, []) =>                         (* dirty branch: `db/branch` is the branch's working set *)
-           match branch_working r b with
-           | Some w => match assoc t (d_schema w) with
-                       | Some cols => ans_eqb a (ARows cols (rows_of t (d_data w)))
-                       | None => is_error a
-                       end
-           | None => is_error a
-           end
-         | _ => match a with ARows _ _ | AHist _ _ => want_commit r v t a | _ => true end   (* refusing is fine; rows must be the right ones *)
-         end
-
-    if revdb_denotes r v then want_commit r v t a
-    else match (norm_base r (fst v), snd v) with
-         | (BBranch b, []) =>                         (* dirty branch: `db/branch` is the branch's working set *)
-           match branch_working r b with
-           | Some w => match assoc t (d_schema w) with
-                       | Some cols => ans_eqb a (ARows cols (rows_of t (d_data w)))
-                       | None => is_error a
-                       end
-           | None => is_error a
-           end
-         | _ => match a with ARows _ _ | AHist _ _ => want_commit r v t a | _ => true end   (* refusing is fine; rows must be the right ones *)
-         end
-
-    if revdb_denotes r v then want_commit r v t a
-    else match (norm_base r (fst v), snd v) with
-         | (BBranch b, []) =>                         (* dirty branch: `db/branch` is the branch's working set *)
-           match branch_working r b with
-           | Some w => match assoc t (d_schema w) with
-                       | Some cols => ans_eqb a (ARows cols (rows_of t (d_data w)))
-                       | None => is_error a
-                       end
-           | None => is_error a
-           end
-         | _ => match a with ARows _ _ | AHist _ _ => want_commit r v t a | _ => true end   (* refusing is fine; rows must be the right ones *)
-         end
-D    if revdb_denotes r v then want_commit r v t a
-    else match (norm_base r (fst v), snd v) with
-         | (BBranch b, []) =>                         (* dirty branch: `db/branch` is the branch's working set *)
-           match branch_working r b with
-           | Some w => match assoc t (d_schema w) with
-                       | Some cols => ans_eqb a (ARows cols (rows_of t (d_data w)))
-                       | None => is_error a
-                       end
-           | None => is_error a
-           end
-         | _ => match a with ARows _ _ | AHist _ _ => want_commit r v t a | _ => true end   (* refusing is fine; rows must be the right ones *)
-         end
-e    if revdb_denotes r v then want_commit r v t a
-    else match (norm_base r (fst v), snd v) with
-         | (BBranch b, []) =>                         (* dirty branch: `db/branch` is the branch's working set *)
-           match branch_working r b with
-           | Some w => match assoc t (d_schema w) with
-                       | Some cols => ans_eqb a (ARows cols (rows_of t (d_data w)))
-                       | None => is_error a
-                       end
-           | None => is_error a
-           end
-         | _ => match a with ARows _ _ | AHist _ _ => want_commit r v t a | _ => true end   (* refusing is fine; rows must be the right ones *)
-         end
-f    if revdb_denotes r v then want_commit r v t a
-    else match (norm_base r (fst v), snd v) with
-         | (BBranch b, []) =>                         (* dirty branch: `db/branch` is the branch's working set *)
-           match branch_working r b with
-           | Some w => match assoc t (d_schema w) with
-                       | Some cols => ans_eqb a (ARows cols (rows_of t (d_data w)))
-                       | None => is_error a
-                       end
-           | None => is_error a
-           end
-         | _ => match a with ARows _ _ | AHist _ _ => want_commit r v t a | _ => true end   (* refusing is fine; rows must be the right ones *)
-         end
-i    if revdb_denotes r v then want_commit r v t a
-    else match (norm_base r (fst v), snd v) with
-         | (BBranch b, []) =>                         (* dirty branch: `db/branch` is the branch's working set *)
-           match branch_working r b with
-           | Some w => match assoc t (d_schema w) with
-                       | Some cols => ans_eqb a (ARows cols (rows_of t (d_data w)))
-                       | None => is_error a
-                       end
-           | None => is_error a
-           end
-         | _ => match a with ARows _ _ | AHist _ _ => want_commit r v t a | _ => true end   (* refusing is fine; rows must be the right ones *)
-         end
-n    if revdb_denotes r v then want_commit r v t a
-    else match (norm_base r (fst v), snd v) with
-         | (BBranch b, []) =>                         (* dirty branch: `db/branch` is the branch's working set *)
-           match branch_working r b with
-           | Some w => match assoc t (d_schema w) with
-                       | Some cols => ans_eqb a (ARows cols (rows_of t (d_data w)))
-                       | None => is_error a
-                       end
-           | None => is_error a
-           end
-         | _ => match a with ARows _ _ | AHist _ _ => want_commit r v t a | _ => true end   (* refusing is fine; rows must be the right ones *)
-         end
-i    if revdb_denotes r v then want_commit r v t a
-    else match (norm_base r (fst v), snd v) with
-         | (BBranch b, []) =>                         (* dirty branch: `db/branch` is the branch's working set *)
-           match branch_working r b with
-           | Some w => match assoc t (d_schema w) with
-                       | Some cols => ans_eqb a (ARows cols (rows_of t (d_data w)))
-                       | None => is_error a
-                       end
-           | None => is_error a
-           end
-         | _ => match a with ARows _ _ | AHist _ _ => want_commit r v t a | _ => true end   (* refusing is fine; rows must be the right ones *)
-         end
-t    if revdb_denotes r v then want_commit r v t a
-    else match (norm_base r (fst v), snd v) with
-         | (BBranch b, []) =>                         (* dirty branch: `db/branch` is the branch's working set *)
-           match branch_working r b with
-           | Some w => match assoc t (d_schema w) with
-                       | Some cols => ans_eqb a (ARows cols (rows_of t (d_data w)))
-                       | None => is_error a
-                       end
-           | None => is_error a
-           end
-         | _ => match a with ARows _ _ | AHist _ _ => want_commit r v t a | _ => true end   (* refusing is fine; rows must be the right ones *)
-         end
-i    if revdb_denotes r v then want_commit r v t a
-    else match (norm_base r (fst v), snd v) with
-         | (BBranch b, []) =>                         (* dirty branch: `db/branch` is the branch's working set *)
-           match branch_working r b with
-           | Some w => match assoc t (d_schema w) with
-                       | Some cols => ans_eqb a (ARows cols (rows_of t (d_data w)))
-                       | None => is_error a
-                       end
-           | None => is_error a
-           end
-         | _ => match a with ARows _ _ | AHist _ _ => want_commit r v t a | _ => true end   (* refusing is fine; rows must be the right ones *)
-         end
-o    if revdb_denotes r v then want_commit r v t a
-    else match (norm_base r (fst v), snd v) with
-         | (BBranch b, []) =>                         (* dirty branch: `db/branch` is the branch's working set *)
-           match branch_working r b with
-           | Some w => match assoc t (d_schema w) with
-                       | Some cols => ans_eqb a (ARows cols (rows_of t (d_data w)))
-                       | None => is_error a
-                       end
-           | None => is_error a
-           end
-         | _ => match a with ARows _ _ | AHist _ _ => want_commit r v t a | _ => true end   (* refusing is fine; rows must be the right ones *)
-         end
-n    if revdb_denotes r v then want_commit r v t a
-    else match (norm_base r (fst v), snd v) with
-         | (BBranch b, []) =>                         (* dirty branch: `db/branch` is the branch's working set *)
-           match branch_working r b with
-           | Some w => match assoc t (d_schema w) with
-                       | Some cols => ans_eqb a (ARows cols (rows_of t (d_data w)))
-                       | None => is_error a
-                       end
-           | None => is_error a
-           end
-         | _ => match a with ARows _ _ | AHist _ _ => want_commit r v t a | _ => true end   (* refusing is fine; rows must be the right ones *)
-         end
-     if revdb_denotes r v then want_commit r v t a
-    else match (norm_base r (fst v), snd v) with
-         | (BBranch b, []) =>                         (* dirty branch: `db/branch` is the branch's working set *)
-           match branch_working r b with
-           | Some w => match assoc t (d_schema w) with
-                       | Some cols => ans_eqb a (ARows cols (rows_of t (d_data w)))
-                       | None => is_error a
-                       end
-           | None => is_error a
-           end
-         | _ => match a with ARows _ _ | AHist _ _ => want_commit r v t a | _ => true end   (* refusing is fine; rows must be the right ones *)
-         end
-r    if revdb_denotes r v then want_commit r v t a
-    else match (norm_base r (fst v), snd v) with
-         | (BBranch b, []) =>                         (* dirty branch: `db/branch` is the branch's working set *)
-           match branch_working r b with
-           | Some w => match assoc t (d_schema w) with
-                       | Some cols => ans_eqb a (ARows cols (rows_of t (d_data w)))
-                       | None => is_error a
-                       end
-           | None => is_error a
-           end
-         | _ => match a with ARows _ _ | AHist _ _ => want_commit r v t a | _ => true end   (* refusing is fine; rows must be the right ones *)
-         end
-e    if revdb_denotes r v then want_commit r v t a
-    else match (norm_base r (fst v), snd v) with
-         | (BBranch b, []) =>                         (* dirty branch: `db/branch` is the branch's working set *)
-           match branch_working r b with
-           | Some w => match assoc t (d_schema w) with
-                       | Some cols => ans_eqb a (ARows cols (rows_of t (d_data w)))
-                       | None => is_error a
-                       end
-           | None => is_error a
-           end
-         | _ => match a with ARows _ _ | AHist _ _ => want_commit r v t a | _ => true end   (* refusing is fine; rows must be the right ones *)
-         end
-v    if revdb_denotes r v then want_commit r v t a
-    else match (norm_base r (fst v), snd v) with
-         | (BBranch b, []) =>                         (* dirty branch: `db/branch` is the branch's working set *)
-           match branch_working r b with
-           | Some w => match assoc t (d_schema w) with
-                       | Some cols => ans_eqb a (ARows cols (rows_of t (d_data w)))
-                       | None => is_error a
-                       end
-           | None => is_error a
-           end
-         | _ => match a with ARows _ _ | AHist _ _ => want_commit r v t a | _ => true end   (* refusing is fine; rows must be the right ones *)
-         end
-d    if revdb_denotes r v then want_commit r v t a
-    else match (norm_base r (fst v), snd v) with
-         | (BBranch b, []) =>                         (* dirty branch: `db/branch` is the branch's working set *)
-           match branch_working r b with
-           | Some w => match assoc t (d_schema w) with
-                       | Some cols => ans_eqb a (ARows cols (rows_of t (d_data w)))
-                       | None => is_error a
-                       end
-           | None => is_error a
-           end
-         | _ => match a with ARows _ _ | AHist _ _ => want_commit r v t a | _ => true end   (* refusing is fine; rows must be the right ones *)
-         end
-b    if revdb_denotes r v then want_commit r v t a
-    else match (norm_base r (fst v), snd v) with
-         | (BBranch b, []) =>                         (* dirty branch: `db/branch` is the branch's working set *)
-           match branch_working r b with
-           | Some w => match assoc t (d_schema w) with
-                       | Some cols => ans_eqb a (ARows cols (rows_of t (d_data w)))
-                       | None => is_error a
-                       end
-           | None => is_error a
-           end
-         | _ => match a with ARows _ _ | AHist _ _ => want_commit r v t a | _ => true end   (* refusing is fine; rows must be the right ones *)
-         end
-_    if revdb_denotes r v then want_commit r v t a
-    else match (norm_base r (fst v), snd v) with
-         | (BBranch b, []) =>                         (* dirty branch: `db/branch` is the branch's working set *)
-           match branch_working r b with
-           | Some w => match assoc t (d_schema w) with
-                       | Some cols => ans_eqb a (ARows cols (rows_of t (d_data w)))
-                       | None => is_error a
-                       end
-           | None => is_error a
-           end
-         | _ => match a with ARows _ _ | AHist _ _ => want_commit r v t a | _ => true end   (* refusing is fine; rows must be the right ones *)
-         end
-d    if revdb_denotes r v then want_commit r v t a
-    else match (norm_base r (fst v), snd v) with
-         | (BBranch b, []) =>                         (* dirty branch: `db/branch` is the branch's working set *)
-           match branch_working r b with
-           | Some w => match assoc t (d_schema w) with
-                       | Some cols => ans_eqb a (ARows cols (rows_of t (d_data w)))
-                       | None => is_error a
-                       end
-           | None => is_error a
-           end
-         | _ => match a with ARows _ _ | AHist _ _ => want_commit r v t a | _ => true end   (* refusing is fine; rows must be the right ones *)
-         end
-e    if revdb_denotes r v then want_commit r v t a
-    else match (norm_base r (fst v), snd v) with
-         | (BBranch b, []) =>                         (* dirty branch: `db/branch` is the branch's working set *)
-           match branch_working r b with
-           | Some w => match assoc t (d_schema w) with
-                       | Some cols => ans_eqb a (ARows cols (rows_of t (d_data w)))
-                       | None => is_error a
-                       end
-           | None => is_error a
-           end
-         | _ => match a with ARows _ _ | AHist _ _ => want_commit r v t a | _ => true end   (* refusing is fine; rows must be the right ones *)
-         end
-n    if revdb_denotes r v then want_commit r v t a
-    else match (norm_base r (fst v), snd v) with
-         | (BBranch b, []) =>                         (* dirty branch: `db/branch` is the branch's working set *)
-           match branch_working r b with
-           | Some w => match assoc t (d_schema w) with
-                       | Some cols => ans_eqb a (ARows cols (rows_of t (d_data w)))
-                       | None => is_error a
-                       end
-           | None => is_error a
-           end
-         | _ => match a with ARows _ _ | AHist _ _ => want_commit r v t a | _ => true end   (* refusing is fine; rows must be the right ones *)
-         end
-o    if revdb_denotes r v then want_commit r v t a
-    else match (norm_base r (fst v), snd v) with
-         | (BBranch b, []) =>                         (* dirty branch: `db/branch` is the branch's working set *)
-           match branch_working r b with
-           | Some w => match assoc t (d_schema w) with
-                       | Some cols => ans_eqb a (ARows cols (rows_of t (d_data w)))
-                       | None => is_error a
-                       end
-           | None => is_error a
-           end
-         | _ => match a with ARows _ _ | AHist _ _ => want_commit r v t a | _ => true end   (* refusing is fine; rows must be the right ones *)
-         end
-t    if revdb_denotes r v then want_commit r v t a
-    else match (norm_base r (fst v), snd v) with
-         | (BBranch b, []) =>                         (* dirty branch: `db/branch` is the branch's working set *)
-           match branch_working r b with
-           | Some w => match assoc t (d_schema w) with
-                       | Some cols => ans_eqb a (ARows cols (rows_of t (d_data w)))
-                       | None => is_error a
-                       end
-           | None => is_error a
-           end
-         | _ => match a with ARows _ _ | AHist _ _ => want_commit r v t a | _ => true end   (* refusing is fine; rows must be the right ones *)
-         end
-e    if revdb_denotes r v then want_commit r v t a
-    else match (norm_base r (fst v), snd v) with
-         | (BBranch b, []) =>                         (* dirty branch: `db/branch` is the branch's working set *)
-           match branch_working r b with
-           | Some w => match assoc t (d_schema w) with
-                       | Some cols => ans_eqb a (ARows cols (rows_of t (d_data w)))
-                       | None => is_error a
-                       end
-           | None => is_error a
-           end
-         | _ => match a with ARows _ _ | AHist _ _ => want_commit r v t a | _ => true end   (* refusing is fine; rows must be the right ones *)
-         end
-s    if revdb_denotes r v then want_commit r v t a
-    else match (norm_base r (fst v), snd v) with
-         | (BBranch b, []) =>                         (* dirty branch: `db/branch` is the branch's working set *)
-           match branch_working r b with
-           | Some w => match assoc t (d_schema w) with
-                       | Some cols => ans_eqb a (ARows cols (rows_of t (d_data w)))
-                       | None => is_error a
-                       end
-           | None => is_error a
-           end
-         | _ => match a with ARows _ _ | AHist _ _ => want_commit r v t a | _ => true end   (* refusing is fine; rows must be the right ones *)
-         end
-     if revdb_denotes r v then want_commit r v t a
-    else match (norm_base r (fst v), snd v) with
-         | (BBranch b, []) =>                         (* dirty branch: `db/branch` is the branch's working set *)
-           match branch_working r b with
-           | Some w => match assoc t (d_schema w) with
-                       | Some cols => ans_eqb a (ARows cols (rows_of t (d_data w)))
-                       | None => is_error a
-                       end
-           | None => is_error a
-           end
-         | _ => match a with ARows _ _ | AHist _ _ => want_commit r v t a | _ => true end   (* refusing is fine; rows must be the right ones *)
-         end
-(    if revdb_denotes r v then want_commit r v t a
-    else match (norm_base r (fst v), snd v) with
-         | (BBranch b, []) =>                         (* dirty branch: `db/branch` is the branch's working set *)
-           match branch_working r b with
-           | Some w => match assoc t (d_schema w) with
-                       | Some cols => ans_eqb a (ARows cols (rows_of t (d_data w)))
-                       | None => is_error a
-                       end
-           | None => is_error a
-           end
-         | _ => match a with ARows _ _ | AHist _ _ => want_commit r v t a | _ => true end   (* refusing is fine; rows must be the right ones *)
-         end
-r    if revdb_denotes r v then want_commit r v t a
-    else match (norm_base r (fst v), snd v) with
-         | (BBranch b, []) =>                         (* dirty branch: `db/branch` is the branch's working set *)
-           match branch_working r b with
-           | Some w => match assoc t (d_schema w) with
-                       | Some cols => ans_eqb a (ARows cols (rows_of t (d_data w)))
-                       | None => is_error a
-                       end
-           | None => is_error a
-           end
-         | _ => match a with ARows _ _ | AHist _ _ => want_commit r v t a | _ => true end   (* refusing is fine; rows must be the right ones *)
-         end
-     if revdb_denotes r v then want_commit r v t a
-    else match (norm_base r (fst v), snd v) with
-         | (BBranch b, []) =>                         (* dirty branch: `db/branch` is the branch's working set *)
-           match branch_working r b with
-           | Some w => match assoc t (d_schema w) with
-                       | Some cols => ans_eqb a (ARows cols (rows_of t (d_data w)))
-                       | None => is_error a
-                       end
-           | None => is_error a
-           end
-         | _ => match a with ARows _ _ | AHist _ _ => want_commit r v t a | _ => true end   (* refusing is fine; rows must be the right ones *)
-         end
-:    if revdb_denotes r v then want_commit r v t a
-    else match (norm_base r (fst v), snd v) with
-         | (BBranch b, []) =>                         (* dirty branch: `db/branch` is the branch's working set *)
-           match branch_working r b with
-           | Some w => match assoc t (d_schema w) with
-                       | Some cols => ans_eqb a (ARows cols (rows_of t (d_data w)))
-                       | None => is_error a
-                       end
-           | None => is_error a
-           end
-         | _ => match a with ARows _ _ | AHist _ _ => want_commit r v t a | _ => true end   (* refusing is fine; rows must be the right ones *)
-         end
-     if revdb_denotes r v then want_commit r v t a
-    else match (norm_base r (fst v), snd v) with
-         | (BBranch b, []) =>                         (* dirty branch: `db/branch` is the branch's working set *)
-           match branch_working r b with
-           | Some w => match assoc t (d_schema w) with
-                       | Some cols => ans_eqb a (ARows cols (rows_of t (d_data w)))
-                       | None => is_error a
-                       end
-           | None => is_error a
-           end
-         | _ => match a with ARows _ _ | AHist _ _ => want_commit r v t a | _ => true end   (* refusing is fine; rows must be the right ones *)
-         end
-r    if revdb_denotes r v then want_commit r v t a
-    else match (norm_base r (fst v), snd v) with
-         | (BBranch b, []) =>                         (* dirty branch: `db/branch` is the branch's working set *)
-           match branch_working r b with
-           | Some w => match assoc t (d_schema w) with
-                       | Some cols => ans_eqb a (ARows cols (rows_of t (d_data w)))
-                       | None => is_error a
-                       end
-           | None => is_error a
-           end
-         | _ => match a with ARows _ _ | AHist _ _ => want_commit r v t a | _ => true end   (* refusing is fine; rows must be the right ones *)
-         end
-e    if revdb_denotes r v then want_commit r v t a
-    else match (norm_base r (fst v), snd v) with
-         | (BBranch b, []) =>                         (* dirty branch: `db/branch` is the branch's working set *)
-           match branch_working r b with
-           | Some w => match assoc t (d_schema w) with
-                       | Some cols => ans_eqb a (ARows cols (rows_of t (d_data w)))
-                       | None => is_error a
-                       end
-           | None => is_error a
-           end
-         | _ => match a with ARows _ _ | AHist _ _ => want_commit r v t a | _ => true end   (* refusing is fine; rows must be the right ones *)
-         end
-p    if revdb_denotes r v then want_commit r v t a
-    else match (norm_base r (fst v), snd v) with
-         | (BBranch b, []) =>                         (* dirty branch: `db/branch` is the branch's working set *)
-           match branch_working r b with
-           | Some w => match assoc t (d_schema w) with
-                       | Some cols => ans_eqb a (ARows cols (rows_of t (d_data w)))
-                       | None => is_error a
-                       end
-           | None => is_error a
-           end
-         | _ => match a with ARows _ _ | AHist _ _ => want_commit r v t a | _ => true end   (* refusing is fine; rows must be the right ones *)
-         end
-o    if revdb_denotes r v then want_commit r v t a
-    else match (norm_base r (fst v), snd v) with
-         | (BBranch b, []) =>                         (* dirty branch: `db/branch` is the branch's working set *)
-           match branch_working r b with
-           | Some w => match assoc t (d_schema w) with
-                       | Some cols => ans_eqb a (ARows cols (rows_of t (d_data w)))
-                       | None => is_error a
-                       end
-           | None => is_error a
-           end
-         | _ => match a with ARows _ _ | AHist _ _ => want_commit r v t a | _ => true end   (* refusing is fine; rows must be the right ones *)
-         end
-)    if revdb_denotes r v then want_commit r v t a
-    else match (norm_base r (fst v), snd v) with
-         | (BBranch b, []) =>                         (* dirty branch: `db/branch` is the branch's working set *)
-           match branch_working r b with
-           | Some w => match assoc t (d_schema w) with
-                       | Some cols => ans_eqb a (ARows cols (rows_of t (d_data w)))
-                       | None => is_error a
-                       end
-           | None => is_error a
-           end
-         | _ => match a with ARows _ _ | AHist _ _ => want_commit r v t a | _ => true end   (* refusing is fine; rows must be the right ones *)
-         end
-     if revdb_denotes r v then want_commit r v t a
-    else match (norm_base r (fst v), snd v) with
-         | (BBranch b, []) =>                         (* dirty branch: `db/branch` is the branch's working set *)
-           match branch_working r b with
-           | Some w => match assoc t (d_schema w) with
-                       | Some cols => ans_eqb a (ARows cols (rows_of t (d_data w)))
-                       | None => is_error a
-                       end
-           | None => is_error a
-           end
-         | _ => match a with ARows _ _ | AHist _ _ => want_commit r v t a | _ => true end   (* refusing is fine; rows must be the right ones *)
-         end
-(    if revdb_denotes r v then want_commit r v t a
-    else match (norm_base r (fst v), snd v) with
-         | (BBranch b, []) =>                         (* dirty branch: `db/branch` is the branch's working set *)
-           match branch_working r b with
-           | Some w => match assoc t (d_schema w) with
-                       | Some cols => ans_eqb a (ARows cols (rows_of t (d_data w)))
-                       | None => is_error a
-                       end
-           | None => is_error a
-           end
-         | _ => match a with ARows _ _ | AHist _ _ => want_commit r v t a | _ => true end   (* refusing is fine; rows must be the right ones *)
-         end
-v    if revdb_denotes r v then want_commit r v t a
-    else match (norm_base r (fst v), snd v) with
-         | (BBranch b, []) =>                         (* dirty branch: `db/branch` is the branch's working set *)
-           match branch_working r b with
-           | Some w => match assoc t (d_schema w) with
-                       | Some cols => ans_eqb a (ARows cols (rows_of t (d_data w)))
-                       | None => is_error a
-                       end
-           | None => is_error a
-           end
-         | _ => match a with ARows _ _ | AHist _ _ => want_commit r v t a | _ => true end   (* refusing is fine; rows must be the right ones *)
-         end
-     if revdb_denotes r v then want_commit r v t a
-    else match (norm_base r (fst v), snd v) with
-         | (BBranch b, []) =>                         (* dirty branch: `db/branch` is the branch's working set *)
-           match branch_working r b with
-           | Some w => match assoc t (d_schema w) with
-                       | Some cols => ans_eqb a (ARows cols (rows_of t (d_data w)))
-                       | None => is_error a
-                       end
-           | None => is_error a
-           end
-         | _ => match a with ARows _ _ | AHist _ _ => want_commit r v t a | _ => true end   (* refusing is fine; rows must be the right ones *)
-         end
-:    if revdb_denotes r v then want_commit r v t a
-    else match (norm_base r (fst v), snd v) with
-         | (BBranch b, []) =>                         (* dirty branch: `db/branch` is the branch's working set *)
-           match branch_working r b with
-           | Some w => match assoc t (d_schema w) with
-                       | Some cols => ans_eqb a (ARows cols (rows_of t (d_data w)))
-                       | None => is_error a
-                       end
-           | None => is_error a
-           end
-         | _ => match a with ARows _ _ | AHist _ _ => want_commit r v t a | _ => true end   (* refusing is fine; rows must be the right ones *)
-         end
-     if revdb_denotes r v then want_commit r v t a
-    else match (norm_base r (fst v), snd v) with
-         | (BBranch b, []) =>                         (* dirty branch: `db/branch` is the branch's working set *)
-           match branch_working r b with
-           | Some w => match assoc t (d_schema w) with
-                       | Some cols => ans_eqb a (ARows cols (rows_of t (d_data w)))
-                       | None => is_error a
-                       end
-           | None => is_error a
-           end
-         | _ => match a with ARows _ _ | AHist _ _ => want_commit r v t a | _ => true end   (* refusing is fine; rows must be the right ones *)
-         end
-r    if revdb_denotes r v then want_commit r v t a
-    else match (norm_base r (fst v), snd v) with
-         | (BBranch b, []) =>                         (* dirty branch: `db/branch` is the branch's working set *)
-           match branch_working r b with
-           | Some w => match assoc t (d_schema w) with
-                       | Some cols => ans_eqb a (ARows cols (rows_of t (d_data w)))
-                       | None => is_error a
-                       end
-           | None => is_error a
-           end
-         | _ => match a with ARows _ _ | AHist _ _ => want_commit r v t a | _ => true end   (* refusing is fine; rows must be the right ones *)
-         end
-e    if revdb_denotes r v then want_commit r v t a
-    else match (norm_base r (fst v), snd v) with
-         | (BBranch b, []) =>                         (* dirty branch: `db/branch` is the branch's working set *)
-           match branch_working r b with
-           | Some w => match assoc t (d_schema w) with
-                       | Some cols => ans_eqb a (ARows cols (rows_of t (d_data w)))
-                       | None => is_error a
-                       end
-           | None => is_error a
-           end
-         | _ => match a with ARows _ _ | AHist _ _ => want_commit r v t a | _ => true end   (* refusing is fine; rows must be the right ones *)
-         end
-v    if revdb_denotes r v then want_commit r v t a
-    else match (norm_base r (fst v), snd v) with
-         | (BBranch b, []) =>                         (* dirty branch: `db/branch` is the branch's working set *)
-           match branch_working r b with
-           | Some w => match assoc t (d_schema w) with
-                       | Some cols => ans_eqb a (ARows cols (rows_of t (d_data w)))
-                       | None => is_error a
-                       end
-           | None => is_error a
-           end
-         | _ => match a with ARows _ _ | AHist _ _ => want_commit r v t a | _ => true end   (* refusing is fine; rows must be the right ones *)
-         end
-)    if revdb_denotes r v then want_commit r v t a
-    else match (norm_base r (fst v), snd v) with
-         | (BBranch b, []) =>                         (* dirty branch: `db/branch` is the branch's working set *)
-           match branch_working r b with
-           | Some w => match assoc t (d_schema w) with
-                       | Some cols => ans_eqb a (ARows cols (rows_of t (d_data w)))
-                       | None => is_error a
-                       end
-           | None => is_error a
-           end
-         | _ => match a with ARows _ _ | AHist _ _ => want_commit r v t a | _ => true end   (* refusing is fine; rows must be the right ones *)
-         end
-     if revdb_denotes r v then want_commit r v t a
-    else match (norm_base r (fst v), snd v) with
-         | (BBranch b, []) =>                         (* dirty branch: `db/branch` is the branch's working set *)
-           match branch_working r b with
-           | Some w => match assoc t (d_schema w) with
-                       | Some cols => ans_eqb a (ARows cols (rows_of t (d_data w)))
-                       | None => is_error a
-                       end
-           | None => is_error a
-           end
-         | _ => match a with ARows _ _ | AHist _ _ => want_commit r v t a | _ => true end   (* refusing is fine; rows must be the right ones *)
-         end
-:    if revdb_denotes r v then want_commit r v t a
-    else match (norm_base r (fst v), snd v) with
-         | (BBranch b, []) =>                         (* dirty branch: `db/branch` is the branch's working set *)
-           match branch_working r b with
-           | Some w => match assoc t (d_schema w) with
-                       | Some cols => ans_eqb a (ARows cols (rows_of t (d_data w)))
-                       | None => is_error a
-                       end
-           | None => is_error a
-           end
-         | _ => match a with ARows _ _ | AHist _ _ => want_commit r v t a | _ => true end   (* refusing is fine; rows must be the right ones *)
-         end
-     if revdb_denotes r v then want_commit r v t a
-    else match (norm_base r (fst v), snd v) with
-         | (BBranch b, []) =>                         (* dirty branch: `db/branch` is the branch's working set *)
-           match branch_working r b with
-           | Some w => match assoc t (d_schema w) with
-                       | Some cols => ans_eqb a (ARows cols (rows_of t (d_data w)))
-                       | None => is_error a
-                       end
-           | None => is_error a
-           end
-         | _ => match a with ARows _ _ | AHist _ _ => want_commit r v t a | _ => true end   (* refusing is fine; rows must be the right ones *)
-         end
-b    if revdb_denotes r v then want_commit r v t a
-    else match (norm_base r (fst v), snd v) with
-         | (BBranch b, []) =>                         (* dirty branch: `db/branch` is the branch's working set *)
-           match branch_working r b with
-           | Some w => match assoc t (d_schema w) with
-                       | Some cols => ans_eqb a (ARows cols (rows_of t (d_data w)))
-                       | None => is_error a
-                       end
-           | None => is_error a
-           end
-         | _ => match a with ARows _ _ | AHist _ _ => want_commit r v t a | _ => true end   (* refusing is fine; rows must be the right ones *)
-         end
-o    if revdb_denotes r v then want_commit r v t a
-    else match (norm_base r (fst v), snd v) with
-         | (BBranch b, []) =>                         (* dirty branch: `db/branch` is the branch's working set *)
-           match branch_working r b with
-           | Some w => match assoc t (d_schema w) with
-                       | Some cols => ans_eqb a (ARows cols (rows_of t (d_data w)))
-                       | None => is_error a
-                       end
-           | None => is_error a
-           end
-         | _ => match a with ARows _ _ | AHist _ _ => want_commit r v t a | _ => true end   (* refusing is fine; rows must be the right ones *)
-         end
-o    if revdb_denotes r v then want_commit r v t a
-    else match (norm_base r (fst v), snd v) with
-         | (BBranch b, []) =>                         (* dirty branch: `db/branch` is the branch's working set *)
-           match branch_working r b with
-           | Some w => match assoc t (d_schema w) with
-                       | Some cols => ans_eqb a (ARows cols (rows_of t (d_data w)))
-                       | None => is_error a
-                       end
-           | None => is_error a
-           end
-         | _ => match a with ARows _ _ | AHist _ _ => want_commit r v t a | _ => true end   (* refusing is fine; rows must be the right ones *)
-         end
-l    if revdb_denotes r v then want_commit r v t a
-    else match (norm_base r (fst v), snd v) with
-         | (BBranch b, []) =>                         (* dirty branch: `db/branch` is the branch's working set *)
-           match branch_working r b with
-           | Some w => match assoc t (d_schema w) with
-                       | Some cols => ans_eqb a (ARows cols (rows_of t (d_data w)))
-                       | None => is_error a
-                       end
-           | None => is_error a
-           end
-         | _ => match a with ARows _ _ | AHist _ _ => want_commit r v t a | _ => true end   (* refusing is fine; rows must be the right ones *)
-         end
-     if revdb_denotes r v then want_commit r v t a
-    else match (norm_base r (fst v), snd v) with
-         | (BBranch b, []) =>                         (* dirty branch: `db/branch` is the branch's working set *)
-           match branch_working r b with
-           | Some w => match assoc t (d_schema w) with
-                       | Some cols => ans_eqb a (ARows cols (rows_of t (d_data w)))
-                       | None => is_error a
-                       end
-           | None => is_error a
-           end
-         | _ => match a with ARows _ _ | AHist _ _ => want_commit r v t a | _ => true end   (* refusing is fine; rows must be the right ones *)
-         end
-:    if revdb_denotes r v then want_commit r v t a
-    else match (norm_base r (fst v), snd v) with
-         | (BBranch b, []) =>                         (* dirty branch: `db/branch` is the branch's working set *)
-           match branch_working r b with
-           | Some w => match assoc t (d_schema w) with
-                       | Some cols => ans_eqb a (ARows cols (rows_of t (d_data w)))
-                       | None => is_error a
-                       end
-           | None => is_error a
-           end
-         | _ => match a with ARows _ _ | AHist _ _ => want_commit r v t a | _ => true end   (* refusing is fine; rows must be the right ones *)
-         end
-=    if revdb_denotes r v then want_commit r v t a
-    else match (norm_base r (fst v), snd v) with
-         | (BBranch b, []) =>                         (* dirty branch: `db/branch` is the branch's working set *)
-           match branch_working r b with
-           | Some w => match assoc t (d_schema w) with
-                       | Some cols => ans_eqb a (ARows cols (rows_of t (d_data w)))
-                       | None => is_error a
-                       end
-           | None => is_error a
-           end
-         | _ => match a with ARows _ _ | AHist _ _ => want_commit r v t a | _ => true end   (* refusing is fine; rows must be the right ones *)
-         end
-
-    if revdb_denotes r v then want_commit r v t a
-    else match (norm_base r (fst v), snd v) with
-         | (BBranch b, []) =>                         (* dirty branch: `db/branch` is the branch's working set *)
-           match branch_working r b with
-           | Some w => match assoc t (d_schema w) with
-                       | Some cols => ans_eqb a (ARows cols (rows_of t (d_data w)))
-                       | None => is_error a
-                       end
-           | None => is_error a
-           end
-         | _ => match a with ARows _ _ | AHist _ _ => want_commit r v t a | _ => true end   (* refusing is fine; rows must be the right ones *)
-         end
-     if revdb_denotes r v then want_commit r v t a
-    else match (norm_base r (fst v), snd v) with
-         | (BBranch b, []) =>                         (* dirty branch: `db/branch` is the branch's working set *)
-           match branch_working r b with
-           | Some w => match assoc t (d_schema w) with
-                       | Some cols => ans_eqb a (ARows cols (rows_of t (d_data w)))
-                       | None => is_error a
-                       end
-           | None => is_error a
-           end
-         | _ => match a with ARows _ _ | AHist _ _ => want_commit r v t a | _ => true end   (* refusing is fine; rows must be the right ones *)
-         end
-     if revdb_denotes r v then want_commit r v t a
-    else match (norm_base r (fst v), snd v) with
-         | (BBranch b, []) =>                         (* dirty branch: `db/branch` is the branch's working set *)
-           match branch_working r b with
-           | Some w => match assoc t (d_schema w) with
-                       | Some cols => ans_eqb a (ARows cols (rows_of t (d_data w)))
-                       | None => is_error a
-                       end
-           | None => is_error a
-           end
-         | _ => match a with ARows _ _ | AHist _ _ => want_commit r v t a | _ => true end   (* refusing is fine; rows must be the right ones *)
-         end
-m    if revdb_denotes r v then want_commit r v t a
-    else match (norm_base r (fst v), snd v) with
-         | (BBranch b, []) =>                         (* dirty branch: `db/branch` is the branch's working set *)
-           match branch_working r b with
-           | Some w => match assoc t (d_schema w) with
-                       | Some cols => ans_eqb a (ARows cols (rows_of t (d_data w)))
-                       | None => is_error a
-                       end
-           | None => is_error a
-           end
-         | _ => match a with ARows _ _ | AHist _ _ => want_commit r v t a | _ => true end   (* refusing is fine; rows must be the right ones *)
-         end
-a    if revdb_denotes r v then want_commit r v t a
-    else match (norm_base r (fst v), snd v) with
-         | (BBranch b, []) =>                         (* dirty branch: `db/branch` is the branch's working set *)
-           match branch_working r b with
-           | Some w => match assoc t (d_schema w) with
-                       | Some cols => ans_eqb a (ARows cols (rows_of t (d_data w)))
-                       | None => is_error a
-                       end
-           | None => is_error a
-           end
-         | _ => match a with ARows _ _ | AHist _ _ => want_commit r v t a | _ => true end   (* refusing is fine; rows must be the right ones *)
-         end
-t    if revdb_denotes r v then want_commit r v t a
-    else match (norm_base r (fst v), snd v) with
-         | (BBranch b, []) =>                         (* dirty branch: `db/branch` is the branch's working set *)
-           match branch_working r b with
-           | Some w => match assoc t (d_schema w) with
-                       | Some cols => ans_eqb a (ARows cols (rows_of t (d_data w)))
-                       | None => is_error a
-                       end
-           | None => is_error a
-           end
-         | _ => match a with ARows _ _ | AHist _ _ => want_commit r v t a | _ => true end   (* refusing is fine; rows must be the right ones *)
-         end
-c    if revdb_denotes r v then want_commit r v t a
-    else match (norm_base r (fst v), snd v) with
-         | (BBranch b, []) =>                         (* dirty branch: `db/branch` is the branch's working set *)
-           match branch_working r b with
-           | Some w => match assoc t (d_schema w) with
-                       | Some cols => ans_eqb a (ARows cols (rows_of t (d_data w)))
-                       | None => is_error a
-                       end
-           | None => is_error a
-           end
-         | _ => match a with ARows _ _ | AHist _ _ => want_commit r v t a | _ => true end   (* refusing is fine; rows must be the right ones *)
-         end
-h    if revdb_denotes r v then want_commit r v t a
-    else match (norm_base r (fst v), snd v) with
-         | (BBranch b, []) =>                         (* dirty branch: `db/branch` is the branch's working set *)
-           match branch_working r b with
-           | Some w => match assoc t (d_schema w) with
-                       | Some cols => ans_eqb a (ARows cols (rows_of t (d_data w)))
-                       | None => is_error a
-                       end
-           | None => is_error a
-           end
-         | _ => match a with ARows _ _ | AHist _ _ => want_commit r v t a | _ => true end   (* refusing is fine; rows must be the right ones *)
-         end
-     if revdb_denotes r v then want_commit r v t a
-    else match (norm_base r (fst v), snd v) with
-         | (BBranch b, []) =>                         (* dirty branch: `db/branch` is the branch's working set *)
-           match branch_working r b with
-           | Some w => match assoc t (d_schema w) with
-                       | Some cols => ans_eqb a (ARows cols (rows_of t (d_data w)))
-                       | None => is_error a
-                       end
-           | None => is_error a
-           end
-         | _ => match a with ARows _ _ | AHist _ _ => want_commit r v t a | _ => true end   (* refusing is fine; rows must be the right ones *)
-         end
-(    if revdb_denotes r v then want_commit r v t a
-    else match (norm_base r (fst v), snd v) with
-         | (BBranch b, []) =>                         (* dirty branch: `db/branch` is the branch's working set *)
-           match branch_working r b with
-           | Some w => match assoc t (d_schema w) with
-                       | Some cols => ans_eqb a (ARows cols (rows_of t (d_data w)))
-                       | None => is_error a
-                       end
-           | None => is_error a
-           end
-         | _ => match a with ARows _ _ | AHist _ _ => want_commit r v t a | _ => true end   (* refusing is fine; rows must be the right ones *)
-         end
-n    if revdb_denotes r v then want_commit r v t a
-    else match (norm_base r (fst v), snd v) with
-         | (BBranch b, []) =>                         (* dirty branch: `db/branch` is the branch's working set *)
-           match branch_working r b with
-           | Some w => match assoc t (d_schema w) with
-                       | Some cols => ans_eqb a (ARows cols (rows_of t (d_data w)))
-                       | None => is_error a
-                       end
-           | None => is_error a
-           end
-         | _ => match a with ARows _ _ | AHist _ _ => want_commit r v t a | _ => true end   (* refusing is fine; rows must be the right ones *)
-         end
-o    if revdb_denotes r v then want_commit r v t a
-    else match (norm_base r (fst v), snd v) with
-         | (BBranch b, []) =>                         (* dirty branch: `db/branch` is the branch's working set *)
-           match branch_working r b with
-           | Some w => match assoc t (d_schema w) with
-                       | Some cols => ans_eqb a (ARows cols (rows_of t (d_data w)))
-                       | None => is_error a
-                       end
-           | None => is_error a
-           end
-         | _ => match a with ARows _ _ | AHist _ _ => want_commit r v t a | _ => true end   (* refusing is fine; rows must be the right ones *)
-         end
-r    if revdb_denotes r v then want_commit r v t a
-    else match (norm_base r (fst v), snd v) with
-         | (BBranch b, []) =>                         (* dirty branch: `db/branch` is the branch's working set *)
-           match branch_working r b with
-           | Some w => match assoc t (d_schema w) with
-                       | Some cols => ans_eqb a (ARows cols (rows_of t (d_data w)))
-                       | None => is_error a
-                       end
-           | None => is_error a
-           end
-         | _ => match a with ARows _ _ | AHist _ _ => want_commit r v t a | _ => true end   (* refusing is fine; rows must be the right ones *)
-         end
-m    if revdb_denotes r v then want_commit r v t a
-    else match (norm_base r (fst v), snd v) with
-         | (BBranch b, []) =>                         (* dirty branch: `db/branch` is the branch's working set *)
-           match branch_working r b with
-           | Some w => match assoc t (d_schema w) with
-                       | Some cols => ans_eqb a (ARows cols (rows_of t (d_data w)))
-                       | None => is_error a
-                       end
-           | None => is_error a
-           end
-         | _ => match a with ARows _ _ | AHist _ _ => want_commit r v t a | _ => true end   (* refusing is fine; rows must be the right ones *)
-         end
-_    if revdb_denotes r v then want_commit r v t a
-    else match (norm_base r (fst v), snd v) with
-         | (BBranch b, []) =>                         (* dirty branch: `db/branch` is the branch's working set *)
-           match branch_working r b with
-           | Some w => match assoc t (d_schema w) with
-                       | Some cols => ans_eqb a (ARows cols (rows_of t (d_data w)))
-                       | None => is_error a
-                       end
-           | None => is_error a
-           end
-         | _ => match a with ARows _ _ | AHist _ _ => want_commit r v t a | _ => true end   (* refusing is fine; rows must be the right ones *)
-         end
-b    if revdb_denotes r v then want_commit r v t a
-    else match (norm_base r (fst v), snd v) with
-         | (BBranch b, []) =>                         (* dirty branch: `db/branch` is the branch's working set *)
-           match branch_working r b with
-           | Some w => match assoc t (d_schema w) with
-                       | Some cols => ans_eqb a (ARows cols (rows_of t (d_data w)))
-                       | None => is_error a
-                       end
-           | None => is_error a
-           end
-         | _ => match a with ARows _ _ | AHist _ _ => want_commit r v t a | _ => true end   (* refusing is fine; rows must be the right ones *)
-         end
-a    if revdb_denotes r v then want_commit r v t a
-    else match (norm_base r (fst v), snd v) with
-         | (BBranch b, []) =>                         (* dirty branch: `db/branch` is the branch's working set *)
-           match branch_working r b with
-           | Some w => match assoc t (d_schema w) with
-                       | Some cols => ans_eqb a (ARows cols (rows_of t (d_data w)))
-                       | None => is_error a
-                       end
-           | None => is_error a
-           end
-         | _ => match a with ARows _ _ | AHist _ _ => want_commit r v t a | _ => true end   (* refusing is fine; rows must be the right ones *)
-         end
-s    if revdb_denotes r v then want_commit r v t a
-    else match (norm_base r (fst v), snd v) with
-         | (BBranch b, []) =>                         (* dirty branch: `db/branch` is the branch's working set *)
-           match branch_working r b with
-           | Some w => match assoc t (d_schema w) with
-                       | Some cols => ans_eqb a (ARows cols (rows_of t (d_data w)))
-                       | None => is_error a
-                       end
-           | None => is_error a
-           end
-         | _ => match a with ARows _ _ | AHist _ _ => want_commit r v t a | _ => true end   (* refusing is fine; rows must be the right ones *)
-         end
-e    if revdb_denotes r v then want_commit r v t a
-    else match (norm_base r (fst v), snd v) with
-         | (BBranch b, []) =>                         (* dirty branch: `db/branch` is the branch's working set *)
-           match branch_working r b with
-           | Some w => match assoc t (d_schema w) with
-                       | Some cols => ans_eqb a (ARows cols (rows_of t (d_data w)))
-                       | None => is_error a
-                       end
-           | None => is_error a
-           end
-         | _ => match a with ARows _ _ | AHist _ _ => want_commit r v t a | _ => true end   (* refusing is fine; rows must be the right ones *)
-         end
-     if revdb_denotes r v then want_commit r v t a
-    else match (norm_base r (fst v), snd v) with
-         | (BBranch b, []) =>                         (* dirty branch: `db/branch` is the branch's working set *)
-           match branch_working r b with
-           | Some w => match assoc t (d_schema w) with
-                       | Some cols => ans_eqb a (ARows cols (rows_of t (d_data w)))
-                       | None => is_error a
-                       end
-           | None => is_error a
-           end
-         | _ => match a with ARows _ _ | AHist _ _ => want_commit r v t a | _ => true end   (* refusing is fine; rows must be the right ones *)
-         end
-r    if revdb_denotes r v then want_commit r v t a
-    else match (norm_base r (fst v), snd v) with
-         | (BBranch b, []) =>                         (* dirty branch: `db/branch` is the branch's working set *)
-           match branch_working r b with
-           | Some w => match assoc t (d_schema w) with
-                       | Some cols => ans_eqb a (ARows cols (rows_of t (d_data w)))
-                       | None => is_error a
-                       end
-           | None => is_error a
-           end
-         | _ => match a with ARows _ _ | AHist _ _ => want_commit r v t a | _ => true end   (* refusing is fine; rows must be the right ones *)
-         end
-     if revdb_denotes r v then want_commit r v t a
-    else match (norm_base r (fst v), snd v) with
-         | (BBranch b, []) =>                         (* dirty branch: `db/branch` is the branch's working set *)
-           match branch_working r b with
-           | Some w => match assoc t (d_schema w) with
-                       | Some cols => ans_eqb a (ARows cols (rows_of t (d_data w)))
-                       | None => is_error a
-                       end
-           | None => is_error a
-           end
-         | _ => match a with ARows _ _ | AHist _ _ => want_commit r v t a | _ => true end   (* refusing is fine; rows must be the right ones *)
-         end
-(    if revdb_denotes r v then want_commit r v t a
-    else match (norm_base r (fst v), snd v) with
-         | (BBranch b, []) =>                         (* dirty branch: `db/branch` is the branch's working set *)
-           match branch_working r b with
-           | Some w => match assoc t (d_schema w) with
-                       | Some cols => ans_eqb a (ARows cols (rows_of t (d_data w)))
-                       | None => is_error a
-                       end
-           | None => is_error a
-           end
-         | _ => match a with ARows _ _ | AHist _ _ => want_commit r v t a | _ => true end   (* refusing is fine; rows must be the right ones *)
-         end
-f    if revdb_denotes r v then want_commit r v t a
-    else match (norm_base r (fst v), snd v) with
-         | (BBranch b, []) =>                         (* dirty branch: `db/branch` is the branch's working set *)
-           match branch_working r b with
-           | Some w => match assoc t (d_schema w) with
-                       | Some cols => ans_eqb a (ARows cols (rows_of t (d_data w)))
-                       | None => is_error a
-                       end
-           | None => is_error a
-           end
-         | _ => match a with ARows _ _ | AHist _ _ => want_commit r v t a | _ => true end   (* refusing is fine; rows must be the right ones *)
-         end
-s    if revdb_denotes r v then want_commit r v t a
-    else match (norm_base r (fst v), snd v) with
-         | (BBranch b, []) =>                         (* dirty branch: `db/branch` is the branch's working set *)
-           match branch_working r b with
-           | Some w => match assoc t (d_schema w) with
-                       | Some cols => ans_eqb a (ARows cols (rows_of t (d_data w)))
-                       | None => is_error a
-                       end
-           | None => is_error a
-           end
-         | _ => match a with ARows _ _ | AHist _ _ => want_commit r v t a | _ => true end   (* refusing is fine; rows must be the right ones *)
-         end
-t    if revdb_denotes r v then want_commit r v t a
-    else match (norm_base r (fst v), snd v) with
-         | (BBranch b, []) =>                         (* dirty branch: `db/branch` is the branch's working set *)
-           match branch_working r b with
-           | Some w => match assoc t (d_schema w) with
-                       | Some cols => ans_eqb a (ARows cols (rows_of t (d_data w)))
-                       | None => is_error a
-                       end
-           | None => is_error a
-           end
-         | _ => match a with ARows _ _ | AHist _ _ => want_commit r v t a | _ => true end   (* refusing is fine; rows must be the right ones *)
-         end
-     if revdb_denotes r v then want_commit r v t a
-    else match (norm_base r (fst v), snd v) with
-         | (BBranch b, []) =>                         (* dirty branch: `db/branch` is the branch's working set *)
-           match branch_working r b with
-           | Some w => match assoc t (d_schema w) with
-                       | Some cols => ans_eqb a (ARows cols (rows_of t (d_data w)))
-                       | None => is_error a
-                       end
-           | None => is_error a
-           end
-         | _ => match a with ARows _ _ | AHist _ _ => want_commit r v t a | _ => true end   (* refusing is fine; rows must be the right ones *)
-         end
-v    if revdb_denotes r v then want_commit r v t a
-    else match (norm_base r (fst v), snd v) with
-         | (BBranch b, []) =>                         (* dirty branch: `db/branch` is the branch's working set *)
-           match branch_working r b with
-           | Some w => match assoc t (d_schema w) with
-                       | Some cols => ans_eqb a (ARows cols (rows_of t (d_data w)))
-                       | None => is_error a
-                       end
-           | None => is_error a
-           end
-         | _ => match a with ARows _ _ | AHist _ _ => want_commit r v t a | _ => true end   (* refusing is fine; rows must be the right ones *)
-         end
-)    if revdb_denotes r v then want_commit r v t a
-    else match (norm_base r (fst v), snd v) with
-         | (BBranch b, []) =>                         (* dirty branch: `db/branch` is the branch's working set *)
-           match branch_working r b with
-           | Some w => match assoc t (d_schema w) with
-                       | Some cols => ans_eqb a (ARows cols (rows_of t (d_data w)))
-                       | None => is_error a
-                       end
-           | None => is_error a
-           end
-         | _ => match a with ARows _ _ | AHist _ _ => want_commit r v t a | _ => true end   (* refusing is fine; rows must be the right ones *)
-         end
-,    if revdb_denotes r v then want_commit r v t a
-    else match (norm_base r (fst v), snd v) with
-         | (BBranch b, []) =>                         (* dirty branch: `db/branch` is the branch's working set *)
-           match branch_working r b with
-           | Some w => match assoc t (d_schema w) with
-                       | Some cols => ans_eqb a (ARows cols (rows_of t (d_data w)))
-                       | None => is_error a
-                       end
-           | None => is_error a
-           end
-         | _ => match a with ARows _ _ | AHist _ _ => want_commit r v t a | _ => true end   (* refusing is fine; rows must be the right ones *)
-         end
-     if revdb_denotes r v then want_commit r v t a
-    else match (norm_base r (fst v), snd v) with
-         | (BBranch b, []) =>                         (* dirty branch: `db/branch` is the branch's working set *)
-           match branch_working r b with
-           | Some w => match assoc t (d_schema w) with
-                       | Some cols => ans_eqb a (ARows cols (rows_of t (d_data w)))
-                       | None => is_error a
-                       end
-           | None => is_error a
-           end
-         | _ => match a with ARows _ _ | AHist _ _ => want_commit r v t a | _ => true end   (* refusing is fine; rows must be the right ones *)
-         end
-s    if revdb_denotes r v then want_commit r v t a
-    else match (norm_base r (fst v), snd v) with
-         | (BBranch b, []) =>                         (* dirty branch: `db/branch` is the branch's working set *)
-           match branch_working r b with
-           | Some w => match assoc t (d_schema w) with
-                       | Some cols => ans_eqb a (ARows cols (rows_of t (d_data w)))
-                       | None => is_error a
-                       end
-           | None => is_error a
-           end
-         | _ => match a with ARows _ _ | AHist _ _ => want_commit r v t a | _ => true end   (* refusing is fine; rows must be the right ones *)
-         end
-n    if revdb_denotes r v then want_commit r v t a
-    else match (norm_base r (fst v), snd v) with
-         | (BBranch b, []) =>                         (* dirty branch: `db/branch` is the branch's working set *)
-           match branch_working r b with
-           | Some w => match assoc t (d_schema w) with
-                       | Some cols => ans_eqb a (ARows cols (rows_of t (d_data w)))
-                       | None => is_error a
-                       end
-           | None => is_error a
-           end
-         | _ => match a with ARows _ _ | AHist _ _ => want_commit r v t a | _ => true end   (* refusing is fine; rows must be the right ones *)
-         end
-d    if revdb_denotes r v then want_commit r v t a
-    else match (norm_base r (fst v), snd v) with
-         | (BBranch b, []) =>                         (* dirty branch: `db/branch` is the branch's working set *)
-           match branch_working r b with
-           | Some w => match assoc t (d_schema w) with
-                       | Some cols => ans_eqb a (ARows cols (rows_of t (d_data w)))
-                       | None => is_error a
-                       end
-           | None => is_error a
-           end
-         | _ => match a with ARows _ _ | AHist _ _ => want_commit r v t a | _ => true end   (* refusing is fine; rows must be the right ones *)
-         end
-     if revdb_denotes r v then want_commit r v t a
-    else match (norm_base r (fst v), snd v) with
-         | (BBranch b, []) =>                         (* dirty branch: `db/branch` is the branch's working set *)
-           match branch_working r b with
-           | Some w => match assoc t (d_schema w) with
-                       | Some cols => ans_eqb a (ARows cols (rows_of t (d_data w)))
-                       | None => is_error a
-                       end
-           | None => is_error a
-           end
-         | _ => match a with ARows _ _ | AHist _ _ => want_commit r v t a | _ => true end   (* refusing is fine; rows must be the right ones *)
-         end
-v    if revdb_denotes r v then want_commit r v t a
-    else match (norm_base r (fst v), snd v) with
-         | (BBranch b, []) =>                         (* dirty branch: `db/branch` is the branch's working set *)
-           match branch_working r b with
-           | Some w => match assoc t (d_schema w) with
-                       | Some cols => ans_eqb a (ARows cols (rows_of t (d_data w)))
-                       | None => is_error a
-                       end
-           | None => is_error a
-           end
-         | _ => match a with ARows _ _ | AHist _ _ => want_commit r v t a | _ => true end   (* refusing is fine; rows must be the right ones *)
-         end
-)    if revdb_denotes r v then want_commit r v t a
-    else match (norm_base r (fst v), snd v) with
-         | (BBranch b, []) =>                         (* dirty branch: `db/branch` is the branch's working set *)
-           match branch_working r b with
-           | Some w => match assoc t (d_schema w) with
-                       | Some cols => ans_eqb a (ARows cols (rows_of t (d_data w)))
-                       | None => is_error a
-                       end
-           | None => is_error a
-           end
-         | _ => match a with ARows _ _ | AHist _ _ => want_commit r v t a | _ => true end   (* refusing is fine; rows must be the right ones *)
-         end
-     if revdb_denotes r v then want_commit r v t a
-    else match (norm_base r (fst v), snd v) with
-         | (BBranch b, []) =>                         (* dirty branch: `db/branch` is the branch's working set *)
-           match branch_working r b with
-           | Some w => match assoc t (d_schema w) with
-                       | Some cols => ans_eqb a (ARows cols (rows_of t (d_data w)))
-                       | None => is_error a
-                       end
-           | None => is_error a
-           end
-         | _ => match a with ARows _ _ | AHist _ _ => want_commit r v t a | _ => true end   (* refusing is fine; rows must be the right ones *)
-         end
-w    if revdb_denotes r v then want_commit r v t a
-    else match (norm_base r (fst v), snd v) with
-         | (BBranch b, []) =>                         (* dirty branch: `db/branch` is the branch's working set *)
-           match branch_working r b with
-           | Some w => match assoc t (d_schema w) with
-                       | Some cols => ans_eqb a (ARows cols (rows_of t (d_data w)))
-                       | None => is_error a
-                       end
-           | None => is_error a
-           end
-         | _ => match a with ARows _ _ | AHist _ _ => want_commit r v t a | _ => true end   (* refusing is fine; rows must be the right ones *)
-         end
-i    if revdb_denotes r v then want_commit r v t a
-    else match (norm_base r (fst v), snd v) with
-         | (BBranch b, []) =>                         (* dirty branch: `db/branch` is the branch's working set *)
-           match branch_working r b with
-           | Some w => match assoc t (d_schema w) with
-                       | Some cols => ans_eqb a (ARows cols (rows_of t (d_data w)))
-                       | None => is_error a
-                       end
-           | None => is_error a
-           end
-         | _ => match a with ARows _ _ | AHist _ _ => want_commit r v t a | _ => true end   (* refusing is fine; rows must be the right ones *)
-         end
-t    if revdb_denotes r v then want_commit r v t a
-    else match (norm_base r (fst v), snd v) with
-         | (BBranch b, []) =>                         (* dirty branch: `db/branch` is the branch's working set *)
-           match branch_working r b with
-           | Some w => match assoc t (d_schema w) with
-                       | Some cols => ans_eqb a (ARows cols (rows_of t (d_data w)))
-                       | None => is_error a
-                       end
-           | None => is_error a
-           end
-         | _ => match a with ARows _ _ | AHist _ _ => want_commit r v t a | _ => true end   (* refusing is fine; rows must be the right ones *)
-         end
-h    if revdb_denotes r v then want_commit r v t a
-    else match (norm_base r (fst v), snd v) with
-         | (BBranch b, []) =>                         (* dirty branch: `db/branch` is the branch's working set *)
-           match branch_working r b with
-           | Some w => match assoc t (d_schema w) with
-                       | Some cols => ans_eqb a (ARows cols (rows_of t (d_data w)))
-                       | None => is_error a
-                       end
-           | None => is_error a
-           end
-         | _ => match a with ARows _ _ | AHist _ _ => want_commit r v t a | _ => true end   (* refusing is fine; rows must be the right ones *)
-         end
-
-    if revdb_denotes r v then want_commit r v t a
-    else match (norm_base r (fst v), snd v) with
-         | (BBranch b, []) =>                         (* dirty branch: `db/branch` is the branch's working set *)
-           match branch_working r b with
-           | Some w => match assoc t (d_schema w) with
-                       | Some cols => ans_eqb a (ARows cols (rows_of t (d_data w)))
-                       | None => is_error a
-                       end
-           | None => is_error a
-           end
-         | _ => match a with ARows _ _ | AHist _ _ => want_commit r v t a | _ => true end   (* refusing is fine; rows must be the right ones *)
-         end
-     if revdb_denotes r v then want_commit r v t a
-    else match (norm_base r (fst v), snd v) with
-         | (BBranch b, []) =>                         (* dirty branch: `db/branch` is the branch's working set *)
-           match branch_working r b with
-           | Some w => match assoc t (d_schema w) with
-                       | Some cols => ans_eqb a (ARows cols (rows_of t (d_data w)))
-                       | None => is_error a
-                       end
-           | None => is_error a
-           end
-         | _ => match a with ARows _ _ | AHist _ _ => want_commit r v t a | _ => true end   (* refusing is fine; rows must be the right ones *)
-         end
-     if revdb_denotes r v then want_commit r v t a
-    else match (norm_base r (fst v), snd v) with
-         | (BBranch b, []) =>                         (* dirty branch: `db/branch` is the branch's working set *)
-           match branch_working r b with
-           | Some w => match assoc t (d_schema w) with
-                       | Some cols => ans_eqb a (ARows cols (rows_of t (d_data w)))
-                       | None => is_error a
-                       end
-           | None => is_error a
-           end
-         | _ => match a with ARows _ _ | AHist _ _ => want_commit r v t a | _ => true end   (* refusing is fine; rows must be the right ones *)
-         end
-|    if revdb_denotes r v then want_commit r v t a
-    else match (norm_base r (fst v), snd v) with
-         | (BBranch b, []) =>                         (* dirty branch: `db/branch` is the branch's working set *)
-           match branch_working r b with
-           | Some w => match assoc t (d_schema w) with
-                       | Some cols => ans_eqb a (ARows cols (rows_of t (d_data w)))
-                       | None => is_error a
-                       end
-           | None => is_error a
-           end
-         | _ => match a with ARows _ _ | AHist _ _ => want_commit r v t a | _ => true end   (* refusing is fine; rows must be the right ones *)
-         end
-     if revdb_denotes r v then want_commit r v t a
-    else match (norm_base r (fst v), snd v) with
-         | (BBranch b, []) =>                         (* dirty branch: `db/branch` is the branch's working set *)
-           match branch_working r b with
-           | Some w => match assoc t (d_schema w) with
-                       | Some cols => ans_eqb a (ARows cols (rows_of t (d_data w)))
-                       | None => is_error a
-                       end
-           | None => is_error a
-           end
-         | _ => match a with ARows _ _ | AHist _ _ => want_commit r v t a | _ => true end   (* refusing is fine; rows must be the right ones *)
-         end
-(    if revdb_denotes r v then want_commit r v t a
-    else match (norm_base r (fst v), snd v) with
-         | (BBranch b, []) =>                         (* dirty branch: `db/branch` is the branch's working set *)
-           match branch_working r b with
-           | Some w => match assoc t (d_schema w) with
-                       | Some cols => ans_eqb a (ARows cols (rows_of t (d_data w)))
-                       | None => is_error a
-                       end
-           | None => is_error a
-           end
-         | _ => match a with ARows _ _ | AHist _ _ => want_commit r v t a | _ => true end   (* refusing is fine; rows must be the right ones *)
-         end
-B    if revdb_denotes r v then want_commit r v t a
-    else match (norm_base r (fst v), snd v) with
-         | (BBranch b, []) =>                         (* dirty branch: `db/branch` is the branch's working set *)
-           match branch_working r b with
-           | Some w => match assoc t (d_schema w) with
-                       | Some cols => ans_eqb a (ARows cols (rows_of t (d_data w)))
-                       | None => is_error a
-                       end
-           | None => is_error a
-           end
-         | _ => match a with ARows _ _ | AHist _ _ => want_commit r v t a | _ => true end   (* refusing is fine; rows must be the right ones *)
-         end
-B    if revdb_denotes r v then want_commit r v t a
-    else match (norm_base r (fst v), snd v) with
-         | (BBranch b, []) =>                         (* dirty branch: `db/branch` is the branch's working set *)
-           match branch_working r b with
-           | Some w => match assoc t (d_schema w) with
-                       | Some cols => ans_eqb a (ARows cols (rows_of t (d_data w)))
-                       | None => is_error a
-                       end
-           | None => is_error a
-           end
-         | _ => match a with ARows _ _ | AHist _ _ => want_commit r v t a | _ => true end   (* refusing is fine; rows must be the right ones *)
-         end
-r    if revdb_denotes r v then want_commit r v t a
-    else match (norm_base r (fst v), snd v) with
-         | (BBranch b, []) =>                         (* dirty branch: `db/branch` is the branch's working set *)
-           match branch_working r b with
-           | Some w => match assoc t (d_schema w) with
-                       | Some cols => ans_eqb a (ARows cols (rows_of t (d_data w)))
-                       | None => is_error a
-                       end
-           | None => is_error a
-           end
-         | _ => match a with ARows _ _ | AHist _ _ => want_commit r v t a | _ => true end   (* refusing is fine; rows must be the right ones *)
-         end
-a    if revdb_denotes r v then want_commit r v t a
-    else match (norm_base r (fst v), snd v) with
-         | (BBranch b, []) =>                         (* dirty branch: `db/branch` is the branch's working set *)
-           match branch_working r b with
-           | Some w => match assoc t (d_schema w) with
-                       | Some cols => ans_eqb a (ARows cols (rows_of t (d_data w)))
-                       | None => is_error a
-                       end
-           | None => is_error a
-           end
-         | _ => match a with ARows _ _ | AHist _ _ => want_commit r v t a | _ => true end   (* refusing is fine; rows must be the right ones *)
-         end
-n    if revdb_denotes r v then want_commit r v t a
-    else match (norm_base r (fst v), snd v) with
-         | (BBranch b, []) =>                         (* dirty branch: `db/branch` is the branch's working set *)
-           match branch_working r b with
-           | Some w => match assoc t (d_schema w) with
-                       | Some cols => ans_eqb a (ARows cols (rows_of t (d_data w)))
-                       | None => is_error a
-                       end
-           | None => is_error a
-           end
-         | _ => match a with ARows _ _ | AHist _ _ => want_commit r v t a | _ => true end   (* refusing is fine; rows must be the right ones *)
-         end
-c    if revdb_denotes r v then want_commit r v t a
-    else match (norm_base r (fst v), snd v) with
-         | (BBranch b, []) =>                         (* dirty branch: `db/branch` is the branch's working set *)
-           match branch_working r b with
-           | Some w => match assoc t (d_schema w) with
-                       | Some cols => ans_eqb a (ARows cols (rows_of t (d_data w)))
-                       | None => is_error a
-                       end
-           | None => is_error a
-           end
-         | _ => match a with ARows _ _ | AHist _ _ => want_commit r v t a | _ => true end   (* refusing is fine; rows must be the right ones *)
-         end
-h    if revdb_denotes r v then want_commit r v t a
-    else match (norm_base r (fst v), snd v) with
-         | (BBranch b, []) =>                         (* dirty branch: `db/branch` is the branch's working set *)
-           match branch_working r b with
-           | Some w => match assoc t (d_schema w) with
-                       | Some cols => ans_eqb a (ARows cols (rows_of t (d_data w)))
-                       | None => is_error a
-                       end
-           | None => is_error a
-           end
-         | _ => match a with ARows _ _ | AHist _ _ => want_commit r v t a | _ => true end   (* refusing is fine; rows must be the right ones *)
-         end
-     if revdb_denotes r v then want_commit r v t a
-    else match (norm_base r (fst v), snd v) with
-         | (BBranch b, []) =>                         (* dirty branch: `db/branch` is the branch's working set *)
-           match branch_working r b with
-           | Some w => match assoc t (d_schema w) with
-                       | Some cols => ans_eqb a (ARows cols (rows_of t (d_data w)))
-                       | None => is_error a
-                       end
-           | None => is_error a
-           end
-         | _ => match a with ARows _ _ | AHist _ _ => want_commit r v t a | _ => true end   (* refusing is fine; rows must be the right ones *)
-         end
-b    if revdb_denotes r v then want_commit r v t a
-    else match (norm_base r (fst v), snd v) with
-         | (BBranch b, []) =>                         (* dirty branch: `db/branch` is the branch's working set *)
-           match branch_working r b with
-           | Some w => match assoc t (d_schema w) with
-                       | Some cols => ans_eqb a (ARows cols (rows_of t (d_data w)))
-                       | None => is_error a
-                       end
-           | None => is_error a
-           end
-         | _ => match a with ARows _ _ | AHist _ _ => want_commit r v t a | _ => true end   (* refusing is fine; rows must be the right ones *)
-         end
-,    if revdb_denotes r v then want_commit r v t a
-    else match (norm_base r (fst v), snd v) with
-         | (BBranch b, []) =>                         (* dirty branch: `db/branch` is the branch's working set *)
-           match branch_working r b with
-           | Some w => match assoc t (d_schema w) with
-                       | Some cols => ans_eqb a (ARows cols (rows_of t (d_data w)))
-                       | None => is_error a
-                       end
-           | None => is_error a
-           end
-         | _ => match a with ARows _ _ | AHist _ _ => want_commit r v t a | _ => true end   (* refusing is fine; rows must be the right ones *)
-         end
-     if revdb_denotes r v then want_commit r v t a
-    else match (norm_base r (fst v), snd v) with
-         | (BBranch b, []) =>                         (* dirty branch: `db/branch` is the branch's working set *)
-           match branch_working r b with
-           | Some w => match assoc t (d_schema w) with
-                       | Some cols => ans_eqb a (ARows cols (rows_of t (d_data w)))
-                       | None => is_error a
-                       end
-           | None => is_error a
-           end
-         | _ => match a with ARows _ _ | AHist _ _ => want_commit r v t a | _ => true end   (* refusing is fine; rows must be the right ones *)
-         end
-[    if revdb_denotes r v then want_commit r v t a
-    else match (norm_base r (fst v), snd v) with
-         | (BBranch b, []) =>                         (* dirty branch: `db/branch` is the branch's working set *)
-           match branch_working r b with
-           | Some w => match assoc t (d_schema w) with
-                       | Some cols => ans_eqb a (ARows cols (rows_of t (d_data w)))
-                       | None => is_error a
-                       end
-           | None => is_error a
-           end
-         | _ => match a with ARows _ _ | AHist _ _ => want_commit r v t a | _ => true end   (* refusing is fine; rows must be the right ones *)
-         end
-]    if revdb_denotes r v then want_commit r v t a
-    else match (norm_base r (fst v), snd v) with
-         | (BBranch b, []) =>                         (* dirty branch: `db/branch` is the branch's working set *)
-           match branch_working r b with
-           | Some w => match assoc t (d_schema w) with
-                       | Some cols => ans_eqb a (ARows cols (rows_of t (d_data w)))
-                       | None => is_error a
-                       end
-           | None => is_error a
-           end
-         | _ => match a with ARows _ _ | AHist _ _ => want_commit r v t a | _ => true end   (* refusing is fine; rows must be the right ones *)
-         end
-)    if revdb_denotes r v then want_commit r v t a
-    else match (norm_base r (fst v), snd v) with
-         | (BBranch b, []) =>                         (* dirty branch: `db/branch` is the branch's working set *)
-           match branch_working r b with
-           | Some w => match assoc t (d_schema w) with
-                       | Some cols => ans_eqb a (ARows cols (rows_of t (d_data w)))
-                       | None => is_error a
-                       end
-           | None => is_error a
-           end
-         | _ => match a with ARows _ _ | AHist _ _ => want_commit r v t a | _ => true end   (* refusing is fine; rows must be the right ones *)
-         end
-     if revdb_denotes r v then want_commit r v t a
-    else match (norm_base r (fst v), snd v) with
-         | (BBranch b, []) =>                         (* dirty branch: `db/branch` is the branch's working set *)
-           match branch_working r b with
-           | Some w => match assoc t (d_schema w) with
-                       | Some cols => ans_eqb a (ARows cols (rows_of t (d_data w)))
-                       | None => is_error a
-                       end
-           | None => is_error a
-           end
-         | _ => match a with ARows _ _ | AHist _ _ => want_commit r v t a | _ => true end   (* refusing is fine; rows must be the right ones *)
-         end
-=    if revdb_denotes r v then want_commit r v t a
-    else match (norm_base r (fst v), snd v) with
-         | (BBranch b, []) =>                         (* dirty branch: `db/branch` is the branch's working set *)
-           match branch_working r b with
-           | Some w => match assoc t (d_schema w) with
-                       | Some cols => ans_eqb a (ARows cols (rows_of t (d_data w)))
-                       | None => is_error a
-                       end
-           | None => is_error a
-           end
-         | _ => match a with ARows _ _ | AHist _ _ => want_commit r v t a | _ => true end   (* refusing is fine; rows must be the right ones *)
-         end
->    if revdb_denotes r v then want_commit r v t a
-    else match (norm_base r (fst v), snd v) with
-         | (BBranch b, []) =>                         (* dirty branch: `db/branch` is the branch's working set *)
-           match branch_working r b with
-           | Some w => match assoc t (d_schema w) with
-                       | Some cols => ans_eqb a (ARows cols (rows_of t (d_data w)))
-                       | None => is_error a
-                       end
-           | None => is_error a
-           end
-         | _ => match a with ARows _ _ | AHist _ _ => want_commit r v t a | _ => true end   (* refusing is fine; rows must be the right ones *)
-         end
-     if revdb_denotes r v then want_commit r v t a
-    else match (norm_base r (fst v), snd v) with
-         | (BBranch b, []) =>                         (* dirty branch: `db/branch` is the branch's working set *)
-           match branch_working r b with
-           | Some w => match assoc t (d_schema w) with
-                       | Some cols => ans_eqb a (ARows cols (rows_of t (d_data w)))
-                       | None => is_error a
-                       end
-           | None => is_error a
-           end
-         | _ => match a with ARows _ _ | AHist _ _ => want_commit r v t a | _ => true end   (* refusing is fine; rows must be the right ones *)
-         end
-b    if revdb_denotes r v then want_commit r v t a
-    else match (norm_base r (fst v), snd v) with
-         | (BBranch b, []) =>                         (* dirty branch: `db/branch` is the branch's working set *)
-           match branch_working r b with
-           | Some w => match assoc t (d_schema w) with
-                       | Some cols => ans_eqb a (ARows cols (rows_of t (d_data w)))
-                       | None => is_error a
-                       end
-           | None => is_error a
-           end
-         | _ => match a with ARows _ _ | AHist _ _ => want_commit r v t a | _ => true end   (* refusing is fine; rows must be the right ones *)
-         end
-r    if revdb_denotes r v then want_commit r v t a
-    else match (norm_base r (fst v), snd v) with
-         | (BBranch b, []) =>                         (* dirty branch: `db/branch` is the branch's working set *)
-           match branch_working r b with
-           | Some w => match assoc t (d_schema w) with
-                       | Some cols => ans_eqb a (ARows cols (rows_of t (d_data w)))
-                       | None => is_error a
-                       end
-           | None => is_error a
-           end
-         | _ => match a with ARows _ _ | AHist _ _ => want_commit r v t a | _ => true end   (* refusing is fine; rows must be the right ones *)
-         end
-a    if revdb_denotes r v then want_commit r v t a
-    else match (norm_base r (fst v), snd v) with
-         | (BBranch b, []) =>                         (* dirty branch: `db/branch` is the branch's working set *)
-           match branch_working r b with
-           | Some w => match assoc t (d_schema w) with
-                       | Some cols => ans_eqb a (ARows cols (rows_of t (d_data w)))
-                       | None => is_error a
-                       end
-           | None => is_error a
-           end
-         | _ => match a with ARows _ _ | AHist _ _ => want_commit r v t a | _ => true end   (* refusing is fine; rows must be the right ones *)
-         end
-n    if revdb_denotes r v then want_commit r v t a
-    else match (norm_base r (fst v), snd v) with
-         | (BBranch b, []) =>                         (* dirty branch: `db/branch` is the branch's working set *)
-           match branch_working r b with
-           | Some w => match assoc t (d_schema w) with
-                       | Some cols => ans_eqb a (ARows cols (rows_of t (d_data w)))
-                       | None => is_error a
-                       end
-           | None => is_error a
-           end
-         | _ => match a with ARows _ _ | AHist _ _ => want_commit r v t a | _ => true end   (* refusing is fine; rows must be the right ones *)
-         end
-c    if revdb_denotes r v then want_commit r v t a
-    else match (norm_base r (fst v), snd v) with
-         | (BBranch b, []) =>                         (* dirty branch: `db/branch` is the branch's working set *)
-           match branch_working r b with
-           | Some w => match assoc t (d_schema w) with
-                       | Some cols => ans_eqb a (ARows cols (rows_of t (d_data w)))
-                       | None => is_error a
-                       end
-           | None => is_error a
-           end
-         | _ => match a with ARows _ _ | AHist _ _ => want_commit r v t a | _ => true end   (* refusing is fine; rows must be the right ones *)
-         end
-h    if revdb_denotes r v then want_commit r v t a
-    else match (norm_base r (fst v), snd v) with
-         | (BBranch b, []) =>                         (* dirty branch: `db/branch` is the branch's working set *)
-           match branch_working r b with
-           | Some w => match assoc t (d_schema w) with
-                       | Some cols => ans_eqb a (ARows cols (rows_of t (d_data w)))
-                       | None => is_error a
-                       end
-           | None => is_error a
-           end
-         | _ => match a with ARows _ _ | AHist _ _ => want_commit r v t a | _ => true end   (* refusing is fine; rows must be the right ones *)
-         end
-_    if revdb_denotes r v then want_commit r v t a
-    else match (norm_base r (fst v), snd v) with
-         | (BBranch b, []) =>                         (* dirty branch: `db/branch` is the branch's working set *)
-           match branch_working r b with
-           | Some w => match assoc t (d_schema w) with
-                       | Some cols => ans_eqb a (ARows cols (rows_of t (d_data w)))
-                       | None => is_error a
-                       end
-           | None => is_error a
-           end
-         | _ => match a with ARows _ _ | AHist _ _ => want_commit r v t a | _ => true end   (* refusing is fine; rows must be the right ones *)
-         end
-c    if revdb_denotes r v then want_commit r v t a
-    else match (norm_base r (fst v), snd v) with
-         | (BBranch b, []) =>                         (* dirty branch: `db/branch` is the branch's working set *)
-           match branch_working r b with
-           | Some w => match assoc t (d_schema w) with
-                       | Some cols => ans_eqb a (ARows cols (rows_of t (d_data w)))
-                       | None => is_error a
-                       end
-           | None => is_error a
-           end
-         | _ => match a with ARows _ _ | AHist _ _ => want_commit r v t a | _ => true end   (* refusing is fine; rows must be the right ones *)
-         end
-l    if revdb_denotes r v then want_commit r v t a
-    else match (norm_base r (fst v), snd v) with
-         | (BBranch b, []) =>                         (* dirty branch: `db/branch` is the branch's working set *)
-           match branch_working r b with
-           | Some w => match assoc t (d_schema w) with
-                       | Some cols => ans_eqb a (ARows cols (rows_of t (d_data w)))
-                       | None => is_error a
-                       end
-           | None => is_error a
-           end
-         | _ => match a with ARows _ _ | AHist _ _ => want_commit r v t a | _ => true end   (* refusing is fine; rows must be the right ones *)
-         end
-e    if revdb_denotes r v then want_commit r v t a
-    else match (norm_base r (fst v), snd v) with
-         | (BBranch b, []) =>                         (* dirty branch: `db/branch` is the branch's working set *)
-           match branch_working r b with
-           | Some w => match assoc t (d_schema w) with
-                       | Some cols => ans_eqb a (ARows cols (rows_of t (d_data w)))
-                       | None => is_error a
-                       end
-           | None => is_error a
-           end
-         | _ => match a with ARows _ _ | AHist _ _ => want_commit r v t a | _ => true end   (* refusing is fine; rows must be the right ones *)
-         end
-a    if revdb_denotes r v then want_commit r v t a
-    else match (norm_base r (fst v), snd v) with
-         | (BBranch b, []) =>                         (* dirty branch: `db/branch` is the branch's working set *)
-           match branch_working r b with
-           | Some w => match assoc t (d_schema w) with
-                       | Some cols => ans_eqb a (ARows cols (rows_of t (d_data w)))
-                       | None => is_error a
-                       end
-           | None => is_error a
-           end
-         | _ => match a with ARows _ _ | AHist _ _ => want_commit r v t a | _ => true end   (* refusing is fine; rows must be the right ones *)
-         end
-n    if revdb_denotes r v then want_commit r v t a
-    else match (norm_base r (fst v), snd v) with
-         | (BBranch b, []) =>                         (* dirty branch: `db/branch` is the branch's working set *)
-           match branch_working r b with
-           | Some w => match assoc t (d_schema w) with
-                       | Some cols => ans_eqb a (ARows cols (rows_of t (d_data w)))
-                       | None => is_error a
-                       end
-           | None => is_error a
-           end
-         | _ => match a with ARows _ _ | AHist _ _ => want_commit r v t a | _ => true end   (* refusing is fine; rows must be the right ones *)
-         end
-b    if revdb_denotes r v then want_commit r v t a
-    else match (norm_base r (fst v), snd v) with
-         | (BBranch b, []) =>                         (* dirty branch: `db/branch` is the branch's working set *)
-           match branch_working r b with
-           | Some w => match assoc t (d_schema w) with
-                       | Some cols => ans_eqb a (ARows cols (rows_of t (d_data w)))
-                       | None => is_error a
-                       end
-           | None => is_error a
-           end
-         | _ => match a with ARows _ _ | AHist _ _ => want_commit r v t a | _ => true end   (* refusing is fine; rows must be the right ones *)
-         end
-     if revdb_denotes r v then want_commit r v t a
-    else match (norm_base r (fst v), snd v) with
-         | (BBranch b, []) =>                         (* dirty branch: `db/branch` is the branch's working set *)
-           match branch_working r b with
-           | Some w => match assoc t (d_schema w) with
-                       | Some cols => ans_eqb a (ARows cols (rows_of t (d_data w)))
-                       | None => is_error a
-                       end
-           | None => is_error a
-           end
-         | _ => match a with ARows _ _ | AHist _ _ => want_commit r v t a | _ => true end   (* refusing is fine; rows must be the right ones *)
-         end
-r    if revdb_denotes r v then want_commit r v t a
-    else match (norm_base r (fst v), snd v) with
-         | (BBranch b, []) =>                         (* dirty branch: `db/branch` is the branch's working set *)
-           match branch_working r b with
-           | Some w => match assoc t (d_schema w) with
-                       | Some cols => ans_eqb a (ARows cols (rows_of t (d_data w)))
-                       | None => is_error a
-                       end
-           | None => is_error a
-           end
-         | _ => match a with ARows _ _ | AHist _ _ => want_commit r v t a | _ => true end   (* refusing is fine; rows must be the right ones *)
-         end
-     if revdb_denotes r v then want_commit r v t a
-    else match (norm_base r (fst v), snd v) with
-         | (BBranch b, []) =>                         (* dirty branch: `db/branch` is the branch's working set *)
-           match branch_working r b with
-           | Some w => match assoc t (d_schema w) with
-                       | Some cols => ans_eqb a (ARows cols (rows_of t (d_data w)))
-                       | None => is_error a
-                       end
-           | None => is_error a
-           end
-         | _ => match a with ARows _ _ | AHist _ _ => want_commit r v t a | _ => true end   (* refusing is fine; rows must be the right ones *)
-         end
-b    if revdb_denotes r v then want_commit r v t a
-    else match (norm_base r (fst v), snd v) with
-         | (BBranch b, []) =>                         (* dirty branch: `db/branch` is the branch's working set *)
-           match branch_working r b with
-           | Some w => match assoc t (d_schema w) with
-                       | Some cols => ans_eqb a (ARows cols (rows_of t (d_data w)))
-                       | None => is_error a
-                       end
-           | None => is_error a
-           end
-         | _ => match a with ARows _ _ | AHist _ _ => want_commit r v t a | _ => true end   (* refusing is fine; rows must be the right ones *)
-         end
-
-    if revdb_denotes r v then want_commit r v t a
-    else match (norm_base r (fst v), snd v) with
-         | (BBranch b, []) =>                         (* dirty branch: `db/branch` is the branch's working set *)
-           match branch_working r b with
-           | Some w => match assoc t (d_schema w) with
-                       | Some cols => ans_eqb a (ARows cols (rows_of t (d_data w)))
-                       | None => is_error a
-                       end
-           | None => is_error a
-           end
-         | _ => match a with ARows _ _ | AHist _ _ => want_commit r v t a | _ => true end   (* refusing is fine; rows must be the right ones *)
-         end
-     if revdb_denotes r v then want_commit r v t a
-    else match (norm_base r (fst v), snd v) with
-         | (BBranch b, []) =>                         (* dirty branch: `db/branch` is the branch's working set *)
-           match branch_working r b with
-           | Some w => match assoc t (d_schema w) with
-                       | Some cols => ans_eqb a (ARows cols (rows_of t (d_data w)))
-                       | None => is_error a
-                       end
-           | None => is_error a
-           end
-         | _ => match a with ARows _ _ | AHist _ _ => want_commit r v t a | _ => true end   (* refusing is fine; rows must be the right ones *)
-         end
-     if revdb_denotes r v then want_commit r v t a
-    else match (norm_base r (fst v), snd v) with
-         | (BBranch b, []) =>                         (* dirty branch: `db/branch` is the branch's working set *)
-           match branch_working r b with
-           | Some w => match assoc t (d_schema w) with
-                       | Some cols => ans_eqb a (ARows cols (rows_of t (d_data w)))
-                       | None => is_error a
-                       end
-           | None => is_error a
-           end
-         | _ => match a with ARows _ _ | AHist _ _ => want_commit r v t a | _ => true end   (* refusing is fine; rows must be the right ones *)
-         end
-|    if revdb_denotes r v then want_commit r v t a
-    else match (norm_base r (fst v), snd v) with
-         | (BBranch b, []) =>                         (* dirty branch: `db/branch` is the branch's working set *)
-           match branch_working r b with
-           | Some w => match assoc t (d_schema w) with
-                       | Some cols => ans_eqb a (ARows cols (rows_of t (d_data w)))
-                       | None => is_error a
-                       end
-           | None => is_error a
-           end
-         | _ => match a with ARows _ _ | AHist _ _ => want_commit r v t a | _ => true end   (* refusing is fine; rows must be the right ones *)
-         end
-     if revdb_denotes r v then want_commit r v t a
-    else match (norm_base r (fst v), snd v) with
-         | (BBranch b, []) =>                         (* dirty branch: `db/branch` is the branch's working set *)
-           match branch_working r b with
-           | Some w => match assoc t (d_schema w) with
-                       | Some cols => ans_eqb a (ARows cols (rows_of t (d_data w)))
-                       | None => is_error a
-                       end
-           | None => is_error a
-           end
-         | _ => match a with ARows _ _ | AHist _ _ => want_commit r v t a | _ => true end   (* refusing is fine; rows must be the right ones *)
-         end
-(    if revdb_denotes r v then want_commit r v t a
-    else match (norm_base r (fst v), snd v) with
-         | (BBranch b, []) =>                         (* dirty branch: `db/branch` is the branch's working set *)
-           match branch_working r b with
-           | Some w => match assoc t (d_schema w) with
-                       | Some cols => ans_eqb a (ARows cols (rows_of t (d_data w)))
-                       | None => is_error a
-                       end
-           | None => is_error a
-           end
-         | _ => match a with ARows _ _ | AHist _ _ => want_commit r v t a | _ => true end   (* refusing is fine; rows must be the right ones *)
-         end
-B    if revdb_denotes r v then want_commit r v t a
-    else match (norm_base r (fst v), snd v) with
-         | (BBranch b, []) =>                         (* dirty branch: `db/branch` is the branch's working set *)
-           match branch_working r b with
-           | Some w => match assoc t (d_schema w) with
-                       | Some cols => ans_eqb a (ARows cols (rows_of t (d_data w)))
-                       | None => is_error a
-                       end
-           | None => is_error a
-           end
-         | _ => match a with ARows _ _ | AHist _ _ => want_commit r v t a | _ => true end   (* refusing is fine; rows must be the right ones *)
-         end
-H    if revdb_denotes r v then want_commit r v t a
-    else match (norm_base r (fst v), snd v) with
-         | (BBranch b, []) =>                         (* dirty branch: `db/branch` is the branch's working set *)
-           match branch_working r b with
-           | Some w => match assoc t (d_schema w) with
-                       | Some cols => ans_eqb a (ARows cols (rows_of t (d_data w)))
-                       | None => is_error a
-                       end
-           | None => is_error a
-           end
-         | _ => match a with ARows _ _ | AHist _ _ => want_commit r v t a | _ => true end   (* refusing is fine; rows must be the right ones *)
-         end
-a    if revdb_denotes r v then want_commit r v t a
-    else match (norm_base r (fst v), snd v) with
-         | (BBranch b, []) =>                         (* dirty branch: `db/branch` is the branch's working set *)
-           match branch_working r b with
-           | Some w => match assoc t (d_schema w) with
-                       | Some cols => ans_eqb a (ARows cols (rows_of t (d_data w)))
-                       | None => is_error a
-                       end
-           | None => is_error a
-           end
-         | _ => match a with ARows _ _ | AHist _ _ => want_commit r v t a | _ => true end   (* refusing is fine; rows must be the right ones *)
-         end
-s    if revdb_denotes r v then want_commit r v t a
-    else match (norm_base r (fst v), snd v) with
-         | (BBranch b, []) =>                         (* dirty branch: `db/branch` is the branch's working set *)
-           match branch_working r b with
-           | Some w => match assoc t (d_schema w) with
-                       | Some cols => ans_eqb a (ARows cols (rows_of t (d_data w)))
-                       | None => is_error a
-                       end
-           | None => is_error a
-           end
-         | _ => match a with ARows _ _ | AHist _ _ => want_commit r v t a | _ => true end   (* refusing is fine; rows must be the right ones *)
-         end
-h    if revdb_denotes r v then want_commit r v t a
-    else match (norm_base r (fst v), snd v) with
-         | (BBranch b, []) =>                         (* dirty branch: `db/branch` is the branch's working set *)
-           match branch_working r b with
-           | Some w => match assoc t (d_schema w) with
-                       | Some cols => ans_eqb a (ARows cols (rows_of t (d_data w)))
-                       | None => is_error a
-                       end
-           | None => is_error a
-           end
-         | _ => match a with ARows _ _ | AHist _ _ => want_commit r v t a | _ => true end   (* refusing is fine; rows must be the right ones *)
-         end
-     if revdb_denotes r v then want_commit r v t a
-    else match (norm_base r (fst v), snd v) with
-         | (BBranch b, []) =>                         (* dirty branch: `db/branch` is the branch's working set *)
-           match branch_working r b with
-           | Some w => match assoc t (d_schema w) with
-                       | Some cols => ans_eqb a (ARows cols (rows_of t (d_data w)))
-                       | None => is_error a
-                       end
-           | None => is_error a
-           end
-         | _ => match a with ARows _ _ | AHist _ _ => want_commit r v t a | _ => true end   (* refusing is fine; rows must be the right ones *)
-         end
-_    if revdb_denotes r v then want_commit r v t a
-    else match (norm_base r (fst v), snd v) with
-         | (BBranch b, []) =>                         (* dirty branch: `db/branch` is the branch's working set *)
-           match branch_working r b with
-           | Some w => match assoc t (d_schema w) with
-                       | Some cols => ans_eqb a (ARows cols (rows_of t (d_data w)))
-                       | None => is_error a
-                       end
-           | None => is_error a
-           end
-         | _ => match a with ARows _ _ | AHist _ _ => want_commit r v t a | _ => true end   (* refusing is fine; rows must be the right ones *)
-         end
-,    if revdb_denotes r v then want_commit r v t a
-    else match (norm_base r (fst v), snd v) with
-         | (BBranch b, []) =>                         (* dirty branch: `db/branch` is the branch's working set *)
-           match branch_working r b with
-           | Some w => match assoc t (d_schema w) with
-                       | Some cols => ans_eqb a (ARows cols (rows_of t (d_data w)))
-                       | None => is_error a
-                       end
-           | None => is_error a
-           end
-         | _ => match a with ARows _ _ | AHist _ _ => want_commit r v t a | _ => true end   (* refusing is fine; rows must be the right ones *)
-         end
-     if revdb_denotes r v then want_commit r v t a
-    else match (norm_base r (fst v), snd v) with
-         | (BBranch b, []) =>                         (* dirty branch: `db/branch` is the branch's working set *)
-           match branch_working r b with
-           | Some w => match assoc t (d_schema w) with
-                       | Some cols => ans_eqb a (ARows cols (rows_of t (d_data w)))
-                       | None => is_error a
-                       end
-           | None => is_error a
-           end
-         | _ => match a with ARows _ _ | AHist _ _ => want_commit r v t a | _ => true end   (* refusing is fine; rows must be the right ones *)
-         end
-_    if revdb_denotes r v then want_commit r v t a
-    else match (norm_base r (fst v), snd v) with
-         | (BBranch b, []) =>                         (* dirty branch: `db/branch` is the branch's working set *)
-           match branch_working r b with
-           | Some w => match assoc t (d_schema w) with
-                       | Some cols => ans_eqb a (ARows cols (rows_of t (d_data w)))
-                       | None => is_error a
-                       end
-           | None => is_error a
-           end
-         | _ => match a with ARows _ _ | AHist _ _ => want_commit r v t a | _ => true end   (* refusing is fine; rows must be the right ones *)
-         end
-     if revdb_denotes r v then want_commit r v t a
-    else match (norm_base r (fst v), snd v) with
-         | (BBranch b, []) =>                         (* dirty branch: `db/branch` is the branch's working set *)
-           match branch_working r b with
-           | Some w => match assoc t (d_schema w) with
-                       | Some cols => ans_eqb a (ARows cols (rows_of t (d_data w)))
-                       | None => is_error a
-                       end
-           | None => is_error a
-           end
-         | _ => match a with ARows _ _ | AHist _ _ => want_commit r v t a | _ => true end   (* refusing is fine; rows must be the right ones *)
-         end
-:    if revdb_denotes r v then want_commit r v t a
-    else match (norm_base r (fst v), snd v) with
-         | (BBranch b, []) =>                         (* dirty branch: `db/branch` is the branch's working set *)
-           match branch_working r b with
-           | Some w => match assoc t (d_schema w) with
-                       | Some cols => ans_eqb a (ARows cols (rows_of t (d_data w)))
-                       | None => is_error a
-                       end
-           | None => is_error a
-           end
-         | _ => match a with ARows _ _ | AHist _ _ => want_commit r v t a | _ => true end   (* refusing is fine; rows must be the right ones *)
-         end
-:    if revdb_denotes r v then want_commit r v t a
-    else match (norm_base r (fst v), snd v) with
-         | (BBranch b, []) =>                         (* dirty branch: `db/branch` is the branch's working set *)
-           match branch_working r b with
-           | Some w => match assoc t (d_schema w) with
-                       | Some cols => ans_eqb a (ARows cols (rows_of t (d_data w)))
-                       | None => is_error a
-                       end
-           | None => is_error a
-           end
-         | _ => match a with ARows _ _ | AHist _ _ => want_commit r v t a | _ => true end   (* refusing is fine; rows must be the right ones *)
-         end
-     if revdb_denotes r v then want_commit r v t a
-    else match (norm_base r (fst v), snd v) with
-         | (BBranch b, []) =>                         (* dirty branch: `db/branch` is the branch's working set *)
-           match branch_working r b with
-           | Some w => match assoc t (d_schema w) with
-                       | Some cols => ans_eqb a (ARows cols (rows_of t (d_data w)))
-                       | None => is_error a
-                       end
-           | None => is_error a
-           end
-         | _ => match a with ARows _ _ | AHist _ _ => want_commit r v t a | _ => true end   (* refusing is fine; rows must be the right ones *)
-         end
-_    if revdb_denotes r v then want_commit r v t a
-    else match (norm_base r (fst v), snd v) with
-         | (BBranch b, []) =>                         (* dirty branch: `db/branch` is the branch's working set *)
-           match branch_working r b with
-           | Some w => match assoc t (d_schema w) with
-                       | Some cols => ans_eqb a (ARows cols (rows_of t (d_data w)))
-                       | None => is_error a
-                       end
-           | None => is_error a
-           end
-         | _ => match a with ARows _ _ | AHist _ _ => want_commit r v t a | _ => true end   (* refusing is fine; rows must be the right ones *)
-         end
-)    if revdb_denotes r v then want_commit r v t a
-    else match (norm_base r (fst v), snd v) with
-         | (BBranch b, []) =>                         (* dirty branch: `db/branch` is the branch's working set *)
-           match branch_working r b with
-           | Some w => match assoc t (d_schema w) with
-                       | Some cols => ans_eqb a (ARows cols (rows_of t (d_data w)))
-                       | None => is_error a
-                       end
-           | None => is_error a
-           end
-         | _ => match a with ARows _ _ | AHist _ _ => want_commit r v t a | _ => true end   (* refusing is fine; rows must be the right ones *)
-         end
-     if revdb_denotes r v then want_commit r v t a
-    else match (norm_base r (fst v), snd v) with
-         | (BBranch b, []) =>                         (* dirty branch: `db/branch` is the branch's working set *)
-           match branch_working r b with
-           | Some w => match assoc t (d_schema w) with
-                       | Some cols => ans_eqb a (ARows cols (rows_of t (d_data w)))
-                       | None => is_error a
-                       end
-           | None => is_error a
-           end
-         | _ => match a with ARows _ _ | AHist _ _ => want_commit r v t a | _ => true end   (* refusing is fine; rows must be the right ones *)
-         end
-=    if revdb_denotes r v then want_commit r v t a
-    else match (norm_base r (fst v), snd v) with
-         | (BBranch b, []) =>                         (* dirty branch: `db/branch` is the branch's working set *)
-           match branch_working r b with
-           | Some w => match assoc t (d_schema w) with
-                       | Some cols => ans_eqb a (ARows cols (rows_of t (d_data w)))
-                       | None => is_error a
-                       end
-           | None => is_error a
-           end
-         | _ => match a with ARows _ _ | AHist _ _ => want_commit r v t a | _ => true end   (* refusing is fine; rows must be the right ones *)
-         end
->    if revdb_denotes r v then want_commit r v t a
-    else match (norm_base r (fst v), snd v) with
-         | (BBranch b, []) =>                         (* dirty branch: `db/branch` is the branch's working set *)
-           match branch_working r b with
-           | Some w => match assoc t (d_schema w) with
-                       | Some cols => ans_eqb a (ARows cols (rows_of t (d_data w)))
-                       | None => is_error a
-                       end
-           | None => is_error a
-           end
-         | _ => match a with ARows _ _ | AHist _ _ => want_commit r v t a | _ => true end   (* refusing is fine; rows must be the right ones *)
-         end
-     if revdb_denotes r v then want_commit r v t a
-    else match (norm_base r (fst v), snd v) with
-         | (BBranch b, []) =>                         (* dirty branch: `db/branch` is the branch's working set *)
-           match branch_working r b with
-           | Some w => match assoc t (d_schema w) with
-                       | Some cols => ans_eqb a (ARows cols (rows_of t (d_data w)))
-                       | None => is_error a
-                       end
-           | None => is_error a
-           end
-         | _ => match a with ARows _ _ | AHist _ _ => want_commit r v t a | _ => true end   (* refusing is fine; rows must be the right ones *)
-         end
-f    if revdb_denotes r v then want_commit r v t a
-    else match (norm_base r (fst v), snd v) with
-         | (BBranch b, []) =>                         (* dirty branch: `db/branch` is the branch's working set *)
-           match branch_working r b with
-           | Some w => match assoc t (d_schema w) with
-                       | Some cols => ans_eqb a (ARows cols (rows_of t (d_data w)))
-                       | None => is_error a
-                       end
-           | None => is_error a
-           end
-         | _ => match a with ARows _ _ | AHist _ _ => want_commit r v t a | _ => true end   (* refusing is fine; rows must be the right ones *)
-         end
-a    if revdb_denotes r v then want_commit r v t a
-    else match (norm_base r (fst v), snd v) with
-         | (BBranch b, []) =>                         (* dirty branch: `db/branch` is the branch's working set *)
-           match branch_working r b with
-           | Some w => match assoc t (d_schema w) with
-                       | Some cols => ans_eqb a (ARows cols (rows_of t (d_data w)))
-                       | None => is_error a
-                       end
-           | None => is_error a
-           end
-         | _ => match a with ARows _ _ | AHist _ _ => want_commit r v t a | _ => true end   (* refusing is fine; rows must be the right ones *)
-         end
-l    if revdb_denotes r v then want_commit r v t a
-    else match (norm_base r (fst v), snd v) with
-         | (BBranch b, []) =>                         (* dirty branch: `db/branch` is the branch's working set *)
-           match branch_working r b with
-           | Some w => match assoc t (d_schema w) with
-                       | Some cols => ans_eqb a (ARows cols (rows_of t (d_data w)))
-                       | None => is_error a
-                       end
-           | None => is_error a
-           end
-         | _ => match a with ARows _ _ | AHist _ _ => want_commit r v t a | _ => true end   (* refusing is fine; rows must be the right ones *)
-         end
-s    if revdb_denotes r v then want_commit r v t a
-    else match (norm_base r (fst v), snd v) with
-         | (BBranch b, []) =>                         (* dirty branch: `db/branch` is the branch's working set *)
-           match branch_working r b with
-           | Some w => match assoc t (d_schema w) with
-                       | Some cols => ans_eqb a (ARows cols (rows_of t (d_data w)))
-                       | None => is_error a
-                       end
-           | None => is_error a
-           end
-         | _ => match a with ARows _ _ | AHist _ _ => want_commit r v t a | _ => true end   (* refusing is fine; rows must be the right ones *)
-         end
-e    if revdb_denotes r v then want_commit r v t a
-    else match (norm_base r (fst v), snd v) with
-         | (BBranch b, []) =>                         (* dirty branch: `db/branch` is the branch's working set *)
-           match branch_working r b with
-           | Some w => match assoc t (d_schema w) with
-                       | Some cols => ans_eqb a (ARows cols (rows_of t (d_data w)))
-                       | None => is_error a
-                       end
-           | None => is_error a
-           end
-         | _ => match a with ARows _ _ | AHist _ _ => want_commit r v t a | _ => true end   (* refusing is fine; rows must be the right ones *)
-         end
-
-    if revdb_denotes r v then want_commit r v t a
-    else match (norm_base r (fst v), snd v) with
-         | (BBranch b, []) =>                         (* dirty branch: `db/branch` is the branch's working set *)
-           match branch_working r b with
-           | Some w => match assoc t (d_schema w) with
-                       | Some cols => ans_eqb a (ARows cols (rows_of t (d_data w)))
-                       | None => is_error a
-                       end
-           | None => is_error a
-           end
-         | _ => match a with ARows _ _ | AHist _ _ => want_commit r v t a | _ => true end   (* refusing is fine; rows must be the right ones *)
-         end
-     if revdb_denotes r v then want_commit r v t a
-    else match (norm_base r (fst v), snd v) with
-         | (BBranch b, []) =>                         (* dirty branch: `db/branch` is the branch's working set *)
-           match branch_working r b with
-           | Some w => match assoc t (d_schema w) with
-                       | Some cols => ans_eqb a (ARows cols (rows_of t (d_data w)))
-                       | None => is_error a
-                       end
-           | None => is_error a
-           end
-         | _ => match a with ARows _ _ | AHist _ _ => want_commit r v t a | _ => true end   (* refusing is fine; rows must be the right ones *)
-         end
-     if revdb_denotes r v then want_commit r v t a
-    else match (norm_base r (fst v), snd v) with
-         | (BBranch b, []) =>                         (* dirty branch: `db/branch` is the branch's working set *)
-           match branch_working r b with
-           | Some w => match assoc t (d_schema w) with
-                       | Some cols => ans_eqb a (ARows cols (rows_of t (d_data w)))
-                       | None => is_error a
-                       end
-           | None => is_error a
-           end
-         | _ => match a with ARows _ _ | AHist _ _ => want_commit r v t a | _ => true end   (* refusing is fine; rows must be the right ones *)
-         end
-|    if revdb_denotes r v then want_commit r v t a
-    else match (norm_base r (fst v), snd v) with
-         | (BBranch b, []) =>                         (* dirty branch: `db/branch` is the branch's working set *)
-           match branch_working r b with
-           | Some w => match assoc t (d_schema w) with
-                       | Some cols => ans_eqb a (ARows cols (rows_of t (d_data w)))
-                       | None => is_error a
-                       end
-           | None => is_error a
-           end
-         | _ => match a with ARows _ _ | AHist _ _ => want_commit r v t a | _ => true end   (* refusing is fine; rows must be the right ones *)
-         end
-     if revdb_denotes r v then want_commit r v t a
-    else match (norm_base r (fst v), snd v) with
-         | (BBranch b, []) =>                         (* dirty branch: `db/branch` is the branch's working set *)
-           match branch_working r b with
-           | Some w => match assoc t (d_schema w) with
-                       | Some cols => ans_eqb a (ARows cols (rows_of t (d_data w)))
-                       | None => is_error a
-                       end
-           | None => is_error a
-           end
-         | _ => match a with ARows _ _ | AHist _ _ => want_commit r v t a | _ => true end   (* refusing is fine; rows must be the right ones *)
-         end
-(    if revdb_denotes r v then want_commit r v t a
-    else match (norm_base r (fst v), snd v) with
-         | (BBranch b, []) =>                         (* dirty branch: `db/branch` is the branch's working set *)
-           match branch_working r b with
-           | Some w => match assoc t (d_schema w) with
-                       | Some cols => ans_eqb a (ARows cols (rows_of t (d_data w)))
-                       | None => is_error a
-                       end
-           | None => is_error a
-           end
-         | _ => match a with ARows _ _ | AHist _ _ => want_commit r v t a | _ => true end   (* refusing is fine; rows must be the right ones *)
-         end
-B    if revdb_denotes r v then want_commit r v t a
-    else match (norm_base r (fst v), snd v) with
-         | (BBranch b, []) =>                         (* dirty branch: `db/branch` is the branch's working set *)
-           match branch_working r b with
-           | Some w => match assoc t (d_schema w) with
-                       | Some cols => ans_eqb a (ARows cols (rows_of t (d_data w)))
-                       | None => is_error a
-                       end
-           | None => is_error a
-           end
-         | _ => match a with ARows _ _ | AHist _ _ => want_commit r v t a | _ => true end   (* refusing is fine; rows must be the right ones *)
-         end
-H    if revdb_denotes r v then want_commit r v t a
-    else match (norm_base r (fst v), snd v) with
-         | (BBranch b, []) =>                         (* dirty branch: `db/branch` is the branch's working set *)
-           match branch_working r b with
-           | Some w => match assoc t (d_schema w) with
-                       | Some cols => ans_eqb a (ARows cols (rows_of t (d_data w)))
-                       | None => is_error a
-                       end
-           | None => is_error a
-           end
-         | _ => match a with ARows _ _ | AHist _ _ => want_commit r v t a | _ => true end   (* refusing is fine; rows must be the right ones *)
-         end
-e    if revdb_denotes r v then want_commit r v t a
-    else match (norm_base r (fst v), snd v) with
-         | (BBranch b, []) =>                         (* dirty branch: `db/branch` is the branch's working set *)
-           match branch_working r b with
-           | Some w => match assoc t (d_schema w) with
-                       | Some cols => ans_eqb a (ARows cols (rows_of t (d_data w)))
-                       | None => is_error a
-                       end
-           | None => is_error a
-           end
-         | _ => match a with ARows _ _ | AHist _ _ => want_commit r v t a | _ => true end   (* refusing is fine; rows must be the right ones *)
-         end
-a    if revdb_denotes r v then want_commit r v t a
-    else match (norm_base r (fst v), snd v) with
-         | (BBranch b, []) =>                         (* dirty branch: `db/branch` is the branch's working set *)
-           match branch_working r b with
-           | Some w => match assoc t (d_schema w) with
-                       | Some cols => ans_eqb a (ARows cols (rows_of t (d_data w)))
-                       | None => is_error a
-                       end
-           | None => is_error a
-           end
-         | _ => match a with ARows _ _ | AHist _ _ => want_commit r v t a | _ => true end   (* refusing is fine; rows must be the right ones *)
-         end
-d    if revdb_denotes r v then want_commit r v t a
-    else match (norm_base r (fst v), snd v) with
-         | (BBranch b, []) =>                         (* dirty branch: `db/branch` is the branch's working set *)
-           match branch_working r b with
-           | Some w => match assoc t (d_schema w) with
-                       | Some cols => ans_eqb a (ARows cols (rows_of t (d_data w)))
-                       | None => is_error a
-                       end
-           | None => is_error a
-           end
-         | _ => match a with ARows _ _ | AHist _ _ => want_commit r v t a | _ => true end   (* refusing is fine; rows must be the right ones *)
-         end
-,    if revdb_denotes r v then want_commit r v t a
-    else match (norm_base r (fst v), snd v) with
-         | (BBranch b, []) =>                         (* dirty branch: `db/branch` is the branch's working set *)
-           match branch_working r b with
-           | Some w => match assoc t (d_schema w) with
-                       | Some cols => ans_eqb a (ARows cols (rows_of t (d_data w)))
-                       | None => is_error a
-                       end
-           | None => is_error a
-           end
-         | _ => match a with ARows _ _ | AHist _ _ => want_commit r v t a | _ => true end   (* refusing is fine; rows must be the right ones *)
-         end
-     if revdb_denotes r v then want_commit r v t a
-    else match (norm_base r (fst v), snd v) with
-         | (BBranch b, []) =>                         (* dirty branch: `db/branch` is the branch's working set *)
-           match branch_working r b with
-           | Some w => match assoc t (d_schema w) with
-                       | Some cols => ans_eqb a (ARows cols (rows_of t (d_data w)))
-                       | None => is_error a
-                       end
-           | None => is_error a
-           end
-         | _ => match a with ARows _ _ | AHist _ _ => want_commit r v t a | _ => true end   (* refusing is fine; rows must be the right ones *)
-         end
-_    if revdb_denotes r v then want_commit r v t a
-    else match (norm_base r (fst v), snd v) with
-         | (BBranch b, []) =>                         (* dirty branch: `db/branch` is the branch's working set *)
-           match branch_working r b with
-           | Some w => match assoc t (d_schema w) with
-                       | Some cols => ans_eqb a (ARows cols (rows_of t (d_data w)))
-                       | None => is_error a
-                       end
-           | None => is_error a
-           end
-         | _ => match a with ARows _ _ | AHist _ _ => want_commit r v t a | _ => true end   (* refusing is fine; rows must be the right ones *)
-         end
-)    if revdb_denotes r v then want_commit r v t a
-    else match (norm_base r (fst v), snd v) with
-         | (BBranch b, []) =>                         (* dirty branch: `db/branch` is the branch's working set *)
-           match branch_working r b with
-           | Some w => match assoc t (d_schema w) with
-                       | Some cols => ans_eqb a (ARows cols (rows_of t (d_data w)))
-                       | None => is_error a
-                       end
-           | None => is_error a
-           end
-         | _ => match a with ARows _ _ | AHist _ _ => want_commit r v t a | _ => true end   (* refusing is fine; rows must be the right ones *)
-         end
-     if revdb_denotes r v then want_commit r v t a
-    else match (norm_base r (fst v), snd v) with
-         | (BBranch b, []) =>                         (* dirty branch: `db/branch` is the branch's working set *)
-           match branch_working r b with
-           | Some w => match assoc t (d_schema w) with
-                       | Some cols => ans_eqb a (ARows cols (rows_of t (d_data w)))
-                       | None => is_error a
-                       end
-           | None => is_error a
-           end
-         | _ => match a with ARows _ _ | AHist _ _ => want_commit r v t a | _ => true end   (* refusing is fine; rows must be the right ones *)
-         end
-=    if revdb_denotes r v then want_commit r v t a
-    else match (norm_base r (fst v), snd v) with
-         | (BBranch b, []) =>                         (* dirty branch: `db/branch` is the branch's working set *)
-           match branch_working r b with
-           | Some w => match assoc t (d_schema w) with
-                       | Some cols => ans_eqb a (ARows cols (rows_of t (d_data w)))
-                       | None => is_error a
-                       end
-           | None => is_error a
-           end
-         | _ => match a with ARows _ _ | AHist _ _ => want_commit r v t a | _ => true end   (* refusing is fine; rows must be the right ones *)
-         end
->    if revdb_denotes r v then want_commit r v t a
-    else match (norm_base r (fst v), snd v) with
-         | (BBranch b, []) =>                         (* dirty branch: `db/branch` is the branch's working set *)
-           match branch_working r b with
-           | Some w => match assoc t (d_schema w) with
-                       | Some cols => ans_eqb a (ARows cols (rows_of t (d_data w)))
-                       | None => is_error a
-                       end
-           | None => is_error a
-           end
-         | _ => match a with ARows _ _ | AHist _ _ => want_commit r v t a | _ => true end   (* refusing is fine; rows must be the right ones *)
-         end
-     if revdb_denotes r v then want_commit r v t a
-    else match (norm_base r (fst v), snd v) with
-         | (BBranch b, []) =>                         (* dirty branch: `db/branch` is the branch's working set *)
-           match branch_working r b with
-           | Some w => match assoc t (d_schema w) with
-                       | Some cols => ans_eqb a (ARows cols (rows_of t (d_data w)))
-                       | None => is_error a
-                       end
-           | None => is_error a
-           end
-         | _ => match a with ARows _ _ | AHist _ _ => want_commit r v t a | _ => true end   (* refusing is fine; rows must be the right ones *)
-         end
-f    if revdb_denotes r v then want_commit r v t a
-    else match (norm_base r (fst v), snd v) with
-         | (BBranch b, []) =>                         (* dirty branch: `db/branch` is the branch's working set *)
-           match branch_working r b with
-           | Some w => match assoc t (d_schema w) with
-                       | Some cols => ans_eqb a (ARows cols (rows_of t (d_data w)))
-                       | None => is_error a
-                       end
-           | None => is_error a
-           end
-         | _ => match a with ARows _ _ | AHist _ _ => want_commit r v t a | _ => true end   (* refusing is fine; rows must be the right ones *)
-         end
-a    if revdb_denotes r v then want_commit r v t a
-    else match (norm_base r (fst v), snd v) with
-         | (BBranch b, []) =>                         (* dirty branch: `db/branch` is the branch's working set *)
-           match branch_working r b with
-           | Some w => match assoc t (d_schema w) with
-                       | Some cols => ans_eqb a (ARows cols (rows_of t (d_data w)))
-                       | None => is_error a
-                       end
-           | None => is_error a
-           end
-         | _ => match a with ARows _ _ | AHist _ _ => want_commit r v t a | _ => true end   (* refusing is fine; rows must be the right ones *)
-         end
-l    if revdb_denotes r v then want_commit r v t a
-    else match (norm_base r (fst v), snd v) with
-         | (BBranch b, []) =>                         (* dirty branch: `db/branch` is the branch's working set *)
-           match branch_working r b with
-           | Some w => match assoc t (d_schema w) with
-                       | Some cols => ans_eqb a (ARows cols (rows_of t (d_data w)))
-                       | None => is_error a
-                       end
-           | None => is_error a
-           end
-         | _ => match a with ARows _ _ | AHist _ _ => want_commit r v t a | _ => true end   (* refusing is fine; rows must be the right ones *)
-         end
-s    if revdb_denotes r v then want_commit r v t a
-    else match (norm_base r (fst v), snd v) with
-         | (BBranch b, []) =>                         (* dirty branch: `db/branch` is the branch's working set *)
-           match branch_working r b with
-           | Some w => match assoc t (d_schema w) with
-                       | Some cols => ans_eqb a (ARows cols (rows_of t (d_data w)))
-                       | None => is_error a
-                       end
-           | None => is_error a
-           end
-         | _ => match a with ARows _ _ | AHist _ _ => want_commit r v t a | _ => true end   (* refusing is fine; rows must be the right ones *)
-         end
-e    if revdb_denotes r v then want_commit r v t a
-    else match (norm_base r (fst v), snd v) with
-         | (BBranch b, []) =>                         (* dirty branch: `db/branch` is the branch's working set *)
-           match branch_working r b with
-           | Some w => match assoc t (d_schema w) with
-                       | Some cols => ans_eqb a (ARows cols (rows_of t (d_data w)))
-                       | None => is_error a
-                       end
-           | None => is_error a
-           end
-         | _ => match a with ARows _ _ | AHist _ _ => want_commit r v t a | _ => true end   (* refusing is fine; rows must be the right ones *)
-         end
-
-    if revdb_denotes r v then want_commit r v t a
-    else match (norm_base r (fst v), snd v) with
-         | (BBranch b, []) =>                         (* dirty branch: `db/branch` is the branch's working set *)
-           match branch_working r b with
-           | Some w => match assoc t (d_schema w) with
-                       | Some cols => ans_eqb a (ARows cols (rows_of t (d_data w)))
-                       | None => is_error a
-                       end
-           | None => is_error a
-           end
-         | _ => match a with ARows _ _ | AHist _ _ => want_commit r v t a | _ => true end   (* refusing is fine; rows must be the right ones *)
-         end
-     if revdb_denotes r v then want_commit r v t a
-    else match (norm_base r (fst v), snd v) with
-         | (BBranch b, []) =>                         (* dirty branch: `db/branch` is the branch's working set *)
-           match branch_working r b with
-           | Some w => match assoc t (d_schema w) with
-                       | Some cols => ans_eqb a (ARows cols (rows_of t (d_data w)))
-                       | None => is_error a
-                       end
-           | None => is_error a
-           end
-         | _ => match a with ARows _ _ | AHist _ _ => want_commit r v t a | _ => true end   (* refusing is fine; rows must be the right ones *)
-         end
-     if revdb_denotes r v then want_commit r v t a
-    else match (norm_base r (fst v), snd v) with
-         | (BBranch b, []) =>                         (* dirty branch: `db/branch` is the branch's working set *)
-           match branch_working r b with
-           | Some w => match assoc t (d_schema w) with
-                       | Some cols => ans_eqb a (ARows cols (rows_of t (d_data w)))
-                       | None => is_error a
-                       end
-           | None => is_error a
-           end
-         | _ => match a with ARows _ _ | AHist _ _ => want_commit r v t a | _ => true end   (* refusing is fine; rows must be the right ones *)
-         end
-|    if revdb_denotes r v then want_commit r v t a
-    else match (norm_base r (fst v), snd v) with
-         | (BBranch b, []) =>                         (* dirty branch: `db/branch` is the branch's working set *)
-           match branch_working r b with
-           | Some w => match assoc t (d_schema w) with
-                       | Some cols => ans_eqb a (ARows cols (rows_of t (d_data w)))
-                       | None => is_error a
-                       end
-           | None => is_error a
-           end
-         | _ => match a with ARows _ _ | AHist _ _ => want_commit r v t a | _ => true end   (* refusing is fine; rows must be the right ones *)
-         end
-     if revdb_denotes r v then want_commit r v t a
-    else match (norm_base r (fst v), snd v) with
-         | (BBranch b, []) =>                         (* dirty branch: `db/branch` is the branch's working set *)
-           match branch_working r b with
-           | Some w => match assoc t (d_schema w) with
-                       | Some cols => ans_eqb a (ARows cols (rows_of t (d_data w)))
-                       | None => is_error a
-                       end
-           | None => is_error a
-           end
-         | _ => match a with ARows _ _ | AHist _ _ => want_commit r v t a | _ => true end   (* refusing is fine; rows must be the right ones *)
-         end
-_    if revdb_denotes r v then want_commit r v t a
-    else match (norm_base r (fst v), snd v) with
-         | (BBranch b, []) =>                         (* dirty branch: `db/branch` is the branch's working set *)
-           match branch_working r b with
-           | Some w => match assoc t (d_schema w) with
-                       | Some cols => ans_eqb a (ARows cols (rows_of t (d_data w)))
-                       | None => is_error a
-                       end
-           | None => is_error a
-           end
-         | _ => match a with ARows _ _ | AHist _ _ => want_commit r v t a | _ => true end   (* refusing is fine; rows must be the right ones *)
-         end
-     if revdb_denotes r v then want_commit r v t a
-    else match (norm_base r (fst v), snd v) with
-         | (BBranch b, []) =>                         (* dirty branch: `db/branch` is the branch's working set *)
-           match branch_working r b with
-           | Some w => match assoc t (d_schema w) with
-                       | Some cols => ans_eqb a (ARows cols (rows_of t (d_data w)))
-                       | None => is_error a
-                       end
-           | None => is_error a
-           end
-         | _ => match a with ARows _ _ | AHist _ _ => want_commit r v t a | _ => true end   (* refusing is fine; rows must be the right ones *)
-         end
-=    if revdb_denotes r v then want_commit r v t a
-    else match (norm_base r (fst v), snd v) with
-         | (BBranch b, []) =>                         (* dirty branch: `db/branch` is the branch's working set *)
-           match branch_working r b with
-           | Some w => match assoc t (d_schema w) with
-                       | Some cols => ans_eqb a (ARows cols (rows_of t (d_data w)))
-                       | None => is_error a
-                       end
-           | None => is_error a
-           end
-         | _ => match a with ARows _ _ | AHist _ _ => want_commit r v t a | _ => true end   (* refusing is fine; rows must be the right ones *)
-         end
->    if revdb_denotes r v then want_commit r v t a
-    else match (norm_base r (fst v), snd v) with
-         | (BBranch b, []) =>                         (* dirty branch: `db/branch` is the branch's working set *)
-           match branch_working r b with
-           | Some w => match assoc t (d_schema w) with
-                       | Some cols => ans_eqb a (ARows cols (rows_of t (d_data w)))
-                       | None => is_error a
-                       end
-           | None => is_error a
-           end
-         | _ => match a with ARows _ _ | AHist _ _ => want_commit r v t a | _ => true end   (* refusing is fine; rows must be the right ones *)
-         end
-     if revdb_denotes r v then want_commit r v t a
-    else match (norm_base r (fst v), snd v) with
-         | (BBranch b, []) =>                         (* dirty branch: `db/branch` is the branch's working set *)
-           match branch_working r b with
-           | Some w => match assoc t (d_schema w) with
-                       | Some cols => ans_eqb a (ARows cols (rows_of t (d_data w)))
-                       | None => is_error a
-                       end
-           | None => is_error a
-           end
-         | _ => match a with ARows _ _ | AHist _ _ => want_commit r v t a | _ => true end   (* refusing is fine; rows must be the right ones *)
-         end
-t    if revdb_denotes r v then want_commit r v t a
-    else match (norm_base r (fst v), snd v) with
-         | (BBranch b, []) =>                         (* dirty branch: `db/branch` is the branch's working set *)
-           match branch_working r b with
-           | Some w => match assoc t (d_schema w) with
-                       | Some cols => ans_eqb a (ARows cols (rows_of t (d_data w)))
-                       | None => is_error a
-                       end
-           | None => is_error a
-           end
-         | _ => match a with ARows _ _ | AHist _ _ => want_commit r v t a | _ => true end   (* refusing is fine; rows must be the right ones *)
-         end
-r    if revdb_denotes r v then want_commit r v t a
-    else match (norm_base r (fst v), snd v) with
-         | (BBranch b, []) =>                         (* dirty branch: `db/branch` is the branch's working set *)
-           match branch_working r b with
-           | Some w => match assoc t (d_schema w) with
-                       | Some cols => ans_eqb a (ARows cols (rows_of t (d_data w)))
-                       | None => is_error a
-                       end
-           | None => is_error a
-           end
-         | _ => match a with ARows _ _ | AHist _ _ => want_commit r v t a | _ => true end   (* refusing is fine; rows must be the right ones *)
-         end
-u    if revdb_denotes r v then want_commit r v t a
-    else match (norm_base r (fst v), snd v) with
-         | (BBranch b, []) =>                         (* dirty branch: `db/branch` is the branch's working set *)
-           match branch_working r b with
-           | Some w => match assoc t (d_schema w) with
-                       | Some cols => ans_eqb a (ARows cols (rows_of t (d_data w)))
-                       | None => is_error a
-                       end
-           | None => is_error a
-           end
-         | _ => match a with ARows _ _ | AHist _ _ => want_commit r v t a | _ => true end   (* refusing is fine; rows must be the right ones *)
-         end
-e    if revdb_denotes r v then want_commit r v t a
-    else match (norm_base r (fst v), snd v) with
-         | (BBranch b, []) =>                         (* dirty branch: `db/branch` is the branch's working set *)
-           match branch_working r b with
-           | Some w => match assoc t (d_schema w) with
-                       | Some cols => ans_eqb a (ARows cols (rows_of t (d_data w)))
-                       | None => is_error a
-                       end
-           | None => is_error a
-           end
-         | _ => match a with ARows _ _ | AHist _ _ => want_commit r v t a | _ => true end   (* refusing is fine; rows must be the right ones *)
-         end
-
-    if revdb_denotes r v then want_commit r v t a
-    else match (norm_base r (fst v), snd v) with
-         | (BBranch b, []) =>                         (* dirty branch: `db/branch` is the branch's working set *)
-           match branch_working r b with
-           | Some w => match assoc t (d_schema w) with
-                       | Some cols => ans_eqb a (ARows cols (rows_of t (d_data w)))
-                       | None => is_error a
-                       end
-           | None => is_error a
-           end
-         | _ => match a with ARows _ _ | AHist _ _ => want_commit r v t a | _ => true end   (* refusing is fine; rows must be the right ones *)
-         end
-     if revdb_denotes r v then want_commit r v t a
-    else match (norm_base r (fst v), snd v) with
-         | (BBranch b, []) =>                         (* dirty branch: `db/branch` is the branch's working set *)
-           match branch_working r b with
-           | Some w => match assoc t (d_schema w) with
-                       | Some cols => ans_eqb a (ARows cols (rows_of t (d_data w)))
-                       | None => is_error a
-                       end
-           | None => is_error a
-           end
-         | _ => match a with ARows _ _ | AHist _ _ => want_commit r v t a | _ => true end   (* refusing is fine; rows must be the right ones *)
-         end
-     if revdb_denotes r v then want_commit r v t a
-    else match (norm_base r (fst v), snd v) with
-         | (BBranch b, []) =>                         (* dirty branch: `db/branch` is the branch's working set *)
-           match branch_working r b with
-           | Some w => match assoc t (d_schema w) with
-                       | Some cols => ans_eqb a (ARows cols (rows_of t (d_data w)))
-                       | None => is_error a
-                       end
-           | None => is_error a
-           end
-         | _ => match a with ARows _ _ | AHist _ _ => want_commit r v t a | _ => true end   (* refusing is fine; rows must be the right ones *)
-         end
-e    if revdb_denotes r v then want_commit r v t a
-    else match (norm_base r (fst v), snd v) with
-         | (BBranch b, []) =>                         (* dirty branch: `db/branch` is the branch's working set *)
-           match branch_working r b with
-           | Some w => match assoc t (d_schema w) with
-                       | Some cols => ans_eqb a (ARows cols (rows_of t (d_data w)))
-                       | None => is_error a
-                       end
-           | None => is_error a
-           end
-         | _ => match a with ARows _ _ | AHist _ _ => want_commit r v t a | _ => true end   (* refusing is fine; rows must be the right ones *)
-         end
-n    if revdb_denotes r v then want_commit r v t a
-    else match (norm_base r (fst v), snd v) with
-         | (BBranch b, []) =>                         (* dirty branch: `db/branch` is the branch's working set *)
-           match branch_working r b with
-           | Some w => match assoc t (d_schema w) with
-                       | Some cols => ans_eqb a (ARows cols (rows_of t (d_data w)))
-                       | None => is_error a
-                       end
-           | None => is_error a
-           end
-         | _ => match a with ARows _ _ | AHist _ _ => want_commit r v t a | _ => true end   (* refusing is fine; rows must be the right ones *)
-         end
-d    if revdb_denotes r v then want_commit r v t a
-    else match (norm_base r (fst v), snd v) with
-         | (BBranch b, []) =>                         (* dirty branch: `db/branch` is the branch's working set *)
-           match branch_working r b with
-           | Some w => match assoc t (d_schema w) with
-                       | Some cols => ans_eqb a (ARows cols (rows_of t (d_data w)))
-                       | None => is_error a
-                       end
-           | None => is_error a
-           end
-         | _ => match a with ARows _ _ | AHist _ _ => want_commit r v t a | _ => true end   (* refusing is fine; rows must be the right ones *)
-         end
-.    if revdb_denotes r v then want_commit r v t a
-    else match (norm_base r (fst v), snd v) with
-         | (BBranch b, []) =>                         (* dirty branch: `db/branch` is the branch's working set *)
-           match branch_working r b with
-           | Some w => match assoc t (d_schema w) with
-                       | Some cols => ans_eqb a (ARows cols (rows_of t (d_data w)))
-                       | None => is_error a
-                       end
-           | None => is_error a
-           end
-         | _ => match a with ARows _ _ | AHist _ _ => want_commit r v t a | _ => true end   (* refusing is fine; rows must be the right ones *)
-         end
-
-    if revdb_denotes r v then want_commit r v t a
-    else match (norm_base r (fst v), snd v) with
-         | (BBranch b, []) =>                         (* dirty branch: `db/branch` is the branch's working set *)
-           match branch_working r b with
-           | Some w => match assoc t (d_schema w) with
-                       | Some cols => ans_eqb a (ARows cols (rows_of t (d_data w)))
-                       | None => is_error a
-                       end
-           | None => is_error a
-           end
-         | _ => match a with ARows _ _ | AHist _ _ => want_commit r v t a | _ => true end   (* refusing is fine; rows must be the right ones *)
-         end
-
-    if revdb_denotes r v then want_commit r v t a
-    else match (norm_base r (fst v), snd v) with
-         | (BBranch b, []) =>                         (* dirty branch: `db/branch` is the branch's working set *)
-           match branch_working r b with
-           | Some w => match assoc t (d_schema w) with
-                       | Some cols => ans_eqb a (ARows cols (rows_of t (d_data w)))
-                       | None => is_error a
-                       end
-           | None => is_error a
-           end
-         | _ => match a with ARows _ _ | AHist _ _ => want_commit r v t a | _ => true end   (* refusing is fine; rows must be the right ones *)
-         end
-D    if revdb_denotes r v then want_commit r v t a
-    else match (norm_base r (fst v), snd v) with
-         | (BBranch b, []) =>                         (* dirty branch: `db/branch` is the branch's working set *)
-           match branch_working r b with
-           | Some w => match assoc t (d_schema w) with
-                       | Some cols => ans_eqb a (ARows cols (rows_of t (d_data w)))
-                       | None => is_error a
-                       end
-           | None => is_error a
-           end
-         | _ => match a with ARows _ _ | AHist _ _ => want_commit r v t a | _ => true end   (* refusing is fine; rows must be the right ones *)
-         end
-e    if revdb_denotes r v then want_commit r v t a
-    else match (norm_base r (fst v), snd v) with
-         | (BBranch b, []) =>                         (* dirty branch: `db/branch` is the branch's working set *)
-           match branch_working r b with
-           | Some w => match assoc t (d_schema w) with
-                       | Some cols => ans_eqb a (ARows cols (rows_of t (d_data w)))
-                       | None => is_error a
-                       end
-           | None => is_error a
-           end
-         | _ => match a with ARows _ _ | AHist _ _ => want_commit r v t a | _ => true end   (* refusing is fine; rows must be the right ones *)
-         end
-f    if revdb_denotes r v then want_commit r v t a
-    else match (norm_base r (fst v), snd v) with
-         | (BBranch b, []) =>                         (* dirty branch: `db/branch` is the branch's working set *)
-           match branch_working r b with
-           | Some w => match assoc t (d_schema w) with
-                       | Some cols => ans_eqb a (ARows cols (rows_of t (d_data w)))
-                       | None => is_error a
-                       end
-           | None => is_error a
-           end
-         | _ => match a with ARows _ _ | AHist _ _ => want_commit r v t a | _ => true end   (* refusing is fine; rows must be the right ones *)
-         end
-i    if revdb_denotes r v then want_commit r v t a
-    else match (norm_base r (fst v), snd v) with
-         | (BBranch b, []) =>                         (* dirty branch: `db/branch` is the branch's working set *)
-           match branch_working r b with
-           | Some w => match assoc t (d_schema w) with
-                       | Some cols => ans_eqb a (ARows cols (rows_of t (d_data w)))
-                       | None => is_error a
-                       end
-           | None => is_error a
-           end
-         | _ => match a with ARows _ _ | AHist _ _ => want_commit r v t a | _ => true end   (* refusing is fine; rows must be the right ones *)
-         end
-n    if revdb_denotes r v then want_commit r v t a
-    else match (norm_base r (fst v), snd v) with
-         | (BBranch b, []) =>                         (* dirty branch: `db/branch` is the branch's working set *)
-           match branch_working r b with
-           | Some w => match assoc t (d_schema w) with
-                       | Some cols => ans_eqb a (ARows cols (rows_of t (d_data w)))
-                       | None => is_error a
-                       end
-           | None => is_error a
-           end
-         | _ => match a with ARows _ _ | AHist _ _ => want_commit r v t a | _ => true end   (* refusing is fine; rows must be the right ones *)
-         end
-i    if revdb_denotes r v then want_commit r v t a
-    else match (norm_base r (fst v), snd v) with
-         | (BBranch b, []) =>                         (* dirty branch: `db/branch` is the branch's working set *)
-           match branch_working r b with
-           | Some w => match assoc t (d_schema w) with
-                       | Some cols => ans_eqb a (ARows cols (rows_of t (d_data w)))
-                       | None => is_error a
-                       end
-           | None => is_error a
-           end
-         | _ => match a with ARows _ _ | AHist _ _ => want_commit r v t a | _ => true end   (* refusing is fine; rows must be the right ones *)
-         end
-t    if revdb_denotes r v then want_commit r v t a
-    else match (norm_base r (fst v), snd v) with
-         | (BBranch b, []) =>                         (* dirty branch: `db/branch` is the branch's working set *)
-           match branch_working r b with
-           | Some w => match assoc t (d_schema w) with
-                       | Some cols => ans_eqb a (ARows cols (rows_of t (d_data w)))
-                       | None => is_error a
-                       end
-           | None => is_error a
-           end
-         | _ => match a with ARows _ _ | AHist _ _ => want_commit r v t a | _ => true end   (* refusing is fine; rows must be the right ones *)
-         end
-i    if revdb_denotes r v then want_commit r v t a
-    else match (norm_base r (fst v), snd v) with
-         | (BBranch b, []) =>                         (* dirty branch: `db/branch` is the branch's working set *)
-           match branch_working r b with
-           | Some w => match assoc t (d_schema w) with
-                       | Some cols => ans_eqb a (ARows cols (rows_of t (d_data w)))
-                       | None => is_error a
-                       end
-           | None => is_error a
-           end
-         | _ => match a with ARows _ _ | AHist _ _ => want_commit r v t a | _ => true end   (* refusing is fine; rows must be the right ones *)
-         end
-o    if revdb_denotes r v then want_commit r v t a
-    else match (norm_base r (fst v), snd v) with
-         | (BBranch b, []) =>                         (* dirty branch: `db/branch` is the branch's working set *)
-           match branch_working r b with
-           | Some w => match assoc t (d_schema w) with
-                       | Some cols => ans_eqb a (ARows cols (rows_of t (d_data w)))
-                       | None => is_error a
-                       end
-           | None => is_error a
-           end
-         | _ => match a with ARows _ _ | AHist _ _ => want_commit r v t a | _ => true end   (* refusing is fine; rows must be the right ones *)
-         end
-n    if revdb_denotes r v then want_commit r v t a
-    else match (norm_base r (fst v), snd v) with
-         | (BBranch b, []) =>                         (* dirty branch: `db/branch` is the branch's working set *)
-           match branch_working r b with
-           | Some w => match assoc t (d_schema w) with
-                       | Some cols => ans_eqb a (ARows cols (rows_of t (d_data w)))
-                       | None => is_error a
-                       end
-           | None => is_error a
-           end
-         | _ => match a with ARows _ _ | AHist _ _ => want_commit r v t a | _ => true end   (* refusing is fine; rows must be the right ones *)
-         end
-     if revdb_denotes r v then want_commit r v t a
-    else match (norm_base r (fst v), snd v) with
-         | (BBranch b, []) =>                         (* dirty branch: `db/branch` is the branch's working set *)
-           match branch_working r b with
-           | Some w => match assoc t (d_schema w) with
-                       | Some cols => ans_eqb a (ARows cols (rows_of t (d_data w)))
-                       | None => is_error a
-                       end
-           | None => is_error a
-           end
-         | _ => match a with ARows _ _ | AHist _ _ => want_commit r v t a | _ => true end   (* refusing is fine; rows must be the right ones *)
-         end
-p    if revdb_denotes r v then want_commit r v t a
-    else match (norm_base r (fst v), snd v) with
-         | (BBranch b, []) =>                         (* dirty branch: `db/branch` is the branch's working set *)
-           match branch_working r b with
-           | Some w => match assoc t (d_schema w) with
-                       | Some cols => ans_eqb a (ARows cols (rows_of t (d_data w)))
-                       | None => is_error a
-                       end
-           | None => is_error a
-           end
-         | _ => match a with ARows _ _ | AHist _ _ => want_commit r v t a | _ => true end   (* refusing is fine; rows must be the right ones *)
-         end
-r    if revdb_denotes r v then want_commit r v t a
-    else match (norm_base r (fst v), snd v) with
-         | (BBranch b, []) =>                         (* dirty branch: `db/branch` is the branch's working set *)
-           match branch_working r b with
-           | Some w => match assoc t (d_schema w) with
-                       | Some cols => ans_eqb a (ARows cols (rows_of t (d_data w)))
-                       | None => is_error a
-                       end
-           | None => is_error a
-           end
-         | _ => match a with ARows _ _ | AHist _ _ => want_commit r v t a | _ => true end   (* refusing is fine; rows must be the right ones *)
-         end
-o    if revdb_denotes r v then want_commit r v t a
-    else match (norm_base r (fst v), snd v) with
-         | (BBranch b, []) =>                         (* dirty branch: `db/branch` is the branch's working set *)
-           match branch_working r b with
-           | Some w => match assoc t (d_schema w) with
-                       | Some cols => ans_eqb a (ARows cols (rows_of t (d_data w)))
-                       | None => is_error a
-                       end
-           | None => is_error a
-           end
-         | _ => match a with ARows _ _ | AHist _ _ => want_commit r v t a | _ => true end   (* refusing is fine; rows must be the right ones *)
-         end
-p    if revdb_denotes r v then want_commit r v t a
-    else match (norm_base r (fst v), snd v) with
-         | (BBranch b, []) =>                         (* dirty branch: `db/branch` is the branch's working set *)
-           match branch_working r b with
-           | Some w => match assoc t (d_schema w) with
-                       | Some cols => ans_eqb a (ARows cols (rows_of t (d_data w)))
-                       | None => is_error a
-                       end
-           | None => is_error a
-           end
-         | _ => match a with ARows _ _ | AHist _ _ => want_commit r v t a | _ => true end   (* refusing is fine; rows must be the right ones *)
-         end
-_    if revdb_denotes r v then want_commit r v t a
-    else match (norm_base r (fst v), snd v) with
-         | (BBranch b, []) =>                         (* dirty branch: `db/branch` is the branch's working set *)
-           match branch_working r b with
-           | Some w => match assoc t (d_schema w) with
-                       | Some cols => ans_eqb a (ARows cols (rows_of t (d_data w)))
-                       | None => is_error a
-                       end
-           | None => is_error a
-           end
-         | _ => match a with ARows _ _ | AHist _ _ => want_commit r v t a | _ => true end   (* refusing is fine; rows must be the right ones *)
-         end
-a    if revdb_denotes r v then want_commit r v t a
-    else match (norm_base r (fst v), snd v) with
-         | (BBranch b, []) =>                         (* dirty branch: `db/branch` is the branch's working set *)
-           match branch_working r b with
-           | Some w => match assoc t (d_schema w) with
-                       | Some cols => ans_eqb a (ARows cols (rows_of t (d_data w)))
-                       | None => is_error a
-                       end
-           | None => is_error a
-           end
-         | _ => match a with ARows _ _ | AHist _ _ => want_commit r v t a | _ => true end   (* refusing is fine; rows must be the right ones *)
-         end
-n    if revdb_denotes r v then want_commit r v t a
-    else match (norm_base r (fst v), snd v) with
-         | (BBranch b, []) =>                         (* dirty branch: `db/branch` is the branch's working set *)
-           match branch_working r b with
-           | Some w => match assoc t (d_schema w) with
-                       | Some cols => ans_eqb a (ARows cols (rows_of t (d_data w)))
-                       | None => is_error a
-                       end
-           | None => is_error a
-           end
-         | _ => match a with ARows _ _ | AHist _ _ => want_commit r v t a | _ => true end   (* refusing is fine; rows must be the right ones *)
-         end
-s    if revdb_denotes r v then want_commit r v t a
-    else match (norm_base r (fst v), snd v) with
-         | (BBranch b, []) =>                         (* dirty branch: `db/branch` is the branch's working set *)
-           match branch_working r b with
-           | Some w => match assoc t (d_schema w) with
-                       | Some cols => ans_eqb a (ARows cols (rows_of t (d_data w)))
-                       | None => is_error a
-                       end
-           | None => is_error a
-           end
-         | _ => match a with ARows _ _ | AHist _ _ => want_commit r v t a | _ => true end   (* refusing is fine; rows must be the right ones *)
-         end
-w    if revdb_denotes r v then want_commit r v t a
-    else match (norm_base r (fst v), snd v) with
-         | (BBranch b, []) =>                         (* dirty branch: `db/branch` is the branch's working set *)
-           match branch_working r b with
-           | Some w => match assoc t (d_schema w) with
-                       | Some cols => ans_eqb a (ARows cols (rows_of t (d_data w)))
-                       | None => is_error a
-                       end
-           | None => is_error a
-           end
-         | _ => match a with ARows _ _ | AHist _ _ => want_commit r v t a | _ => true end   (* refusing is fine; rows must be the right ones *)
-         end
-e    if revdb_denotes r v then want_commit r v t a
-    else match (norm_base r (fst v), snd v) with
-         | (BBranch b, []) =>                         (* dirty branch: `db/branch` is the branch's working set *)
-           match branch_working r b with
-           | Some w => match assoc t (d_schema w) with
-                       | Some cols => ans_eqb a (ARows cols (rows_of t (d_data w)))
-                       | None => is_error a
-                       end
-           | None => is_error a
-           end
-         | _ => match a with ARows _ _ | AHist _ _ => want_commit r v t a | _ => true end   (* refusing is fine; rows must be the right ones *)
-         end
-r    if revdb_denotes r v then want_commit r v t a
-    else match (norm_base r (fst v), snd v) with
-         | (BBranch b, []) =>                         (* dirty branch: `db/branch` is the branch's working set *)
-           match branch_working r b with
-           | Some w => match assoc t (d_schema w) with
-                       | Some cols => ans_eqb a (ARows cols (rows_of t (d_data w)))
-                       | None => is_error a
-                       end
-           | None => is_error a
-           end
-         | _ => match a with ARows _ _ | AHist _ _ => want_commit r v t a | _ => true end   (* refusing is fine; rows must be the right ones *)
-         end
-     if revdb_denotes r v then want_commit r v t a
-    else match (norm_base r (fst v), snd v) with
-         | (BBranch b, []) =>                         (* dirty branch: `db/branch` is the branch's working set *)
-           match branch_working r b with
-           | Some w => match assoc t (d_schema w) with
-                       | Some cols => ans_eqb a (ARows cols (rows_of t (d_data w)))
-                       | None => is_error a
-                       end
-           | None => is_error a
-           end
-         | _ => match a with ARows _ _ | AHist _ _ => want_commit r v t a | _ => true end   (* refusing is fine; rows must be the right ones *)
-         end
-(    if revdb_denotes r v then want_commit r v t a
-    else match (norm_base r (fst v), snd v) with
-         | (BBranch b, []) =>                         (* dirty branch: `db/branch` is the branch's working set *)
-           match branch_working r b with
-           | Some w => match assoc t (d_schema w) with
-                       | Some cols => ans_eqb a (ARows cols (rows_of t (d_data w)))
-                       | None => is_error a
-                       end
-           | None => is_error a
-           end
-         | _ => match a with ARows _ _ | AHist _ _ => want_commit r v t a | _ => true end   (* refusing is fine; rows must be the right ones *)
-         end
-r    if revdb_denotes r v then want_commit r v t a
-    else match (norm_base r (fst v), snd v) with
-         | (BBranch b, []) =>                         (* dirty branch: `db/branch` is the branch's working set *)
-           match branch_working r b with
-           | Some w => match assoc t (d_schema w) with
-                       | Some cols => ans_eqb a (ARows cols (rows_of t (d_data w)))
-                       | None => is_error a
-                       end
-           | None => is_error a
-           end
-         | _ => match a with ARows _ _ | AHist _ _ => want_commit r v t a | _ => true end   (* refusing is fine; rows must be the right ones *)
-         end
-     if revdb_denotes r v then want_commit r v t a
-    else match (norm_base r (fst v), snd v) with
-         | (BBranch b, []) =>                         (* dirty branch: `db/branch` is the branch's working set *)
-           match branch_working r b with
-           | Some w => match assoc t (d_schema w) with
-                       | Some cols => ans_eqb a (ARows cols (rows_of t (d_data w)))
-                       | None => is_error a
-                       end
-           | None => is_error a
-           end
-         | _ => match a with ARows _ _ | AHist _ _ => want_commit r v t a | _ => true end   (* refusing is fine; rows must be the right ones *)
-         end
-:    if revdb_denotes r v then want_commit r v t a
-    else match (norm_base r (fst v), snd v) with
-         | (BBranch b, []) =>                         (* dirty branch: `db/branch` is the branch's working set *)
-           match branch_working r b with
-           | Some w => match assoc t (d_schema w) with
-                       | Some cols => ans_eqb a (ARows cols (rows_of t (d_data w)))
-                       | None => is_error a
-                       end
-           | None => is_error a
-           end
-         | _ => match a with ARows _ _ | AHist _ _ => want_commit r v t a | _ => true end   (* refusing is fine; rows must be the right ones *)
-         end
-     if revdb_denotes r v then want_commit r v t a
-    else match (norm_base r (fst v), snd v) with
-         | (BBranch b, []) =>                         (* dirty branch: `db/branch` is the branch's working set *)
-           match branch_working r b with
-           | Some w => match assoc t (d_schema w) with
-                       | Some cols => ans_eqb a (ARows cols (rows_of t (d_data w)))
-                       | None => is_error a
-                       end
-           | None => is_error a
-           end
-         | _ => match a with ARows _ _ | AHist _ _ => want_commit r v t a | _ => true end   (* refusing is fine; rows must be the right ones *)
-         end
-r    if revdb_denotes r v then want_commit r v t a
-    else match (norm_base r (fst v), snd v) with
-         | (BBranch b, []) =>                         (* dirty branch: `db/branch` is the branch's working set *)
-           match branch_working r b with
-           | Some w => match assoc t (d_schema w) with
-                       | Some cols => ans_eqb a (ARows cols (rows_of t (d_data w)))
-                       | None => is_error a
-                       end
-           | None => is_error a
-           end
-         | _ => match a with ARows _ _ | AHist _ _ => want_commit r v t a | _ => true end   (* refusing is fine; rows must be the right ones *)
-         end
-e    if revdb_denotes r v then want_commit r v t a
-    else match (norm_base r (fst v), snd v) with
-         | (BBranch b, []) =>                         (* dirty branch: `db/branch` is the branch's working set *)
-           match branch_working r b with
-           | Some w => match assoc t (d_schema w) with
-                       | Some cols => ans_eqb a (ARows cols (rows_of t (d_data w)))
-                       | None => is_error a
-                       end
-           | None => is_error a
-           end
-         | _ => match a with ARows _ _ | AHist _ _ => want_commit r v t a | _ => true end   (* refusing is fine; rows must be the right ones *)
-         end
-p    if revdb_denotes r v then want_commit r v t a
-    else match (norm_base r (fst v), snd v) with
-         | (BBranch b, []) =>                         (* dirty branch: `db/branch` is the branch's working set *)
-           match branch_working r b with
-           | Some w => match assoc t (d_schema w) with
-                       | Some cols => ans_eqb a (ARows cols (rows_of t (d_data w)))
-                       | None => is_error a
-                       end
-           | None => is_error a
-           end
-         | _ => match a with ARows _ _ | AHist _ _ => want_commit r v t a | _ => true end   (* refusing is fine; rows must be the right ones *)
-         end
-o    if revdb_denotes r v then want_commit r v t a
-    else match (norm_base r (fst v), snd v) with
-         | (BBranch b, []) =>                         (* dirty branch: `db/branch` is the branch's working set *)
-           match branch_working r b with
-           | Some w => match assoc t (d_schema w) with
-                       | Some cols => ans_eqb a (ARows cols (rows_of t (d_data w)))
-                       | None => is_error a
-                       end
-           | None => is_error a
-           end
-         | _ => match a with ARows _ _ | AHist _ _ => want_commit r v t a | _ => true end   (* refusing is fine; rows must be the right ones *)
-         end
-)    if revdb_denotes r v then want_commit r v t a
-    else match (norm_base r (fst v), snd v) with
-         | (BBranch b, []) =>                         (* dirty branch: `db/branch` is the branch's working set *)
-           match branch_working r b with
-           | Some w => match assoc t (d_schema w) with
-                       | Some cols => ans_eqb a (ARows cols (rows_of t (d_data w)))
-                       | None => is_error a
-                       end
-           | None => is_error a
-           end
-         | _ => match a with ARows _ _ | AHist _ _ => want_commit r v t a | _ => true end   (* refusing is fine; rows must be the right ones *)
-         end
-     if revdb_denotes r v then want_commit r v t a
-    else match (norm_base r (fst v), snd v) with
-         | (BBranch b, []) =>                         (* dirty branch: `db/branch` is the branch's working set *)
-           match branch_working r b with
-           | Some w => match assoc t (d_schema w) with
-                       | Some cols => ans_eqb a (ARows cols (rows_of t (d_data w)))
-                       | None => is_error a
-                       end
-           | None => is_error a
-           end
-         | _ => match a with ARows _ _ | AHist _ _ => want_commit r v t a | _ => true end   (* refusing is fine; rows must be the right ones *)
-         end
-(    if revdb_denotes r v then want_commit r v t a
-    else match (norm_base r (fst v), snd v) with
-         | (BBranch b, []) =>                         (* dirty branch: `db/branch` is the branch's working set *)
-           match branch_working r b with
-           | Some w => match assoc t (d_schema w) with
-                       | Some cols => ans_eqb a (ARows cols (rows_of t (d_data w)))
-                       | None => is_error a
-                       end
-           | None => is_error a
-           end
-         | _ => match a with ARows _ _ | AHist _ _ => want_commit r v t a | _ => true end   (* refusing is fine; rows must be the right ones *)
-         end
-q    if revdb_denotes r v then want_commit r v t a
-    else match (norm_base r (fst v), snd v) with
-         | (BBranch b, []) =>                         (* dirty branch: `db/branch` is the branch's working set *)
-           match branch_working r b with
-           | Some w => match assoc t (d_schema w) with
-                       | Some cols => ans_eqb a (ARows cols (rows_of t (d_data w)))
-                       | None => is_error a
-                       end
-           | None => is_error a
-           end
-         | _ => match a with ARows _ _ | AHist _ _ => want_commit r v t a | _ => true end   (* refusing is fine; rows must be the right ones *)
-         end
-     if revdb_denotes r v then want_commit r v t a
-    else match (norm_base r (fst v), snd v) with
-         | (BBranch b, []) =>                         (* dirty branch: `db/branch` is the branch's working set *)
-           match branch_working r b with
-           | Some w => match assoc t (d_schema w) with
-                       | Some cols => ans_eqb a (ARows cols (rows_of t (d_data w)))
-                       | None => is_error a
-                       end
-           | None => is_error a
-           end
-         | _ => match a with ARows _ _ | AHist _ _ => want_commit r v t a | _ => true end   (* refusing is fine; rows must be the right ones *)
-         end
-:    if revdb_denotes r v then want_commit r v t a
-    else match (norm_base r (fst v), snd v) with
-         | (BBranch b, []) =>                         (* dirty branch: `db/branch` is the branch's working set *)
-           match branch_working r b with
-           | Some w => match assoc t (d_schema w) with
-                       | Some cols => ans_eqb a (ARows cols (rows_of t (d_data w)))
-                       | None => is_error a
-                       end
-           | None => is_error a
-           end
-         | _ => match a with ARows _ _ | AHist _ _ => want_commit r v t a | _ => true end   (* refusing is fine; rows must be the right ones *)
-         end
-     if revdb_denotes r v then want_commit r v t a
-    else match (norm_base r (fst v), snd v) with
-         | (BBranch b, []) =>                         (* dirty branch: `db/branch` is the branch's working set *)
-           match branch_working r b with
-           | Some w => match assoc t (d_schema w) with
-                       | Some cols => ans_eqb a (ARows cols (rows_of t (d_data w)))
-                       | None => is_error a
-                       end
-           | None => is_error a
-           end
-         | _ => match a with ARows _ _ | AHist _ _ => want_commit r v t a | _ => true end   (* refusing is fine; rows must be the right ones *)
-         end
-q    if revdb_denotes r v then want_commit r v t a
-    else match (norm_base r (fst v), snd v) with
-         | (BBranch b, []) =>                         (* dirty branch: `db/branch` is the branch's working set *)
-           match branch_working r b with
-           | Some w => match assoc t (d_schema w) with
-                       | Some cols => ans_eqb a (ARows cols (rows_of t (d_data w)))
-                       | None => is_error a
-                       end
-           | None => is_error a
-           end
-         | _ => match a with ARows _ _ | AHist _ _ => want_commit r v t a | _ => true end   (* refusing is fine; rows must be the right ones *)
-         end
-u    if revdb_denotes r v then want_commit r v t a
-    else match (norm_base r (fst v), snd v) with
-         | (BBranch b, []) =>                         (* dirty branch: `db/branch` is the branch's working set *)
-           match branch_working r b with
-           | Some w => match assoc t (d_schema w) with
-                       | Some cols => ans_eqb a (ARows cols (rows_of t (d_data w)))
-                       | None => is_error a
-                       end
-           | None => is_error a
-           end
-         | _ => match a with ARows _ _ | AHist _ _ => want_commit r v t a | _ => true end   (* refusing is fine; rows must be the right ones *)
-         end
-e    if revdb_denotes r v then want_commit r v t a
-    else match (norm_base r (fst v), snd v) with
-         | (BBranch b, []) =>                         (* dirty branch: `db/branch` is the branch's working set *)
-           match branch_working r b with
-           | Some w => match assoc t (d_schema w) with
-                       | Some cols => ans_eqb a (ARows cols (rows_of t (d_data w)))
-                       | None => is_error a
-                       end
-           | None => is_error a
-           end
-         | _ => match a with ARows _ _ | AHist _ _ => want_commit r v t a | _ => true end   (* refusing is fine; rows must be the right ones *)
-         end
-r    if revdb_denotes r v then want_commit r v t a
-    else match (norm_base r (fst v), snd v) with
-         | (BBranch b, []) =>                         (* dirty branch: `db/branch` is the branch's working set *)
-           match branch_working r b with
-           | Some w => match assoc t (d_schema w) with
-                       | Some cols => ans_eqb a (ARows cols (rows_of t (d_data w)))
-                       | None => is_error a
-                       end
-           | None => is_error a
-           end
-         | _ => match a with ARows _ _ | AHist _ _ => want_commit r v t a | _ => true end   (* refusing is fine; rows must be the right ones *)
-         end
-y    if revdb_denotes r v then want_commit r v t a
-    else match (norm_base r (fst v), snd v) with
-         | (BBranch b, []) =>                         (* dirty branch: `db/branch` is the branch's working set *)
-           match branch_working r b with
-           | Some w => match assoc t (d_schema w) with
-                       | Some cols => ans_eqb a (ARows cols (rows_of t (d_data w)))
-                       | None => is_error a
-                       end
-           | None => is_error a
-           end
-         | _ => match a with ARows _ _ | AHist _ _ => want_commit r v t a | _ => true end   (* refusing is fine; rows must be the right ones *)
-         end
-)    if revdb_denotes r v then want_commit r v t a
-    else match (norm_base r (fst v), snd v) with
-         | (BBranch b, []) =>                         (* dirty branch: `db/branch` is the branch's working set *)
-           match branch_working r b with
-           | Some w => match assoc t (d_schema w) with
-                       | Some cols => ans_eqb a (ARows cols (rows_of t (d_data w)))
-                       | None => is_error a
-                       end
-           | None => is_error a
-           end
-         | _ => match a with ARows _ _ | AHist _ _ => want_commit r v t a | _ => true end   (* refusing is fine; rows must be the right ones *)
-         end
-     if revdb_denotes r v then want_commit r v t a
-    else match (norm_base r (fst v), snd v) with
-         | (BBranch b, []) =>                         (* dirty branch: `db/branch` is the branch's working set *)
-           match branch_working r b with
-           | Some w => match assoc t (d_schema w) with
-                       | Some cols => ans_eqb a (ARows cols (rows_of t (d_data w)))
-                       | None => is_error a
-                       end
-           | None => is_error a
-           end
-         | _ => match a with ARows _ _ | AHist _ _ => want_commit r v t a | _ => true end   (* refusing is fine; rows must be the right ones *)
-         end
-(    if revdb_denotes r v then want_commit r v t a
-    else match (norm_base r (fst v), snd v) with
-         | (BBranch b, []) =>                         (* dirty branch: `db/branch` is the branch's working set *)
-           match branch_working r b with
-           | Some w => match assoc t (d_schema w) with
-                       | Some cols => ans_eqb a (ARows cols (rows_of t (d_data w)))
-                       | None => is_error a
-                       end
-           | None => is_error a
-           end
-         | _ => match a with ARows _ _ | AHist _ _ => want_commit r v t a | _ => true end   (* refusing is fine; rows must be the right ones *)
-         end
-a    if revdb_denotes r v then want_commit r v t a
-    else match (norm_base r (fst v), snd v) with
-         | (BBranch b, []) =>                         (* dirty branch: `db/branch` is the branch's working set *)
-           match branch_working r b with
-           | Some w => match assoc t (d_schema w) with
-                       | Some cols => ans_eqb a (ARows cols (rows_of t (d_data w)))
-                       | None => is_error a
-                       end
-           | None => is_error a
-           end
-         | _ => match a with ARows _ _ | AHist _ _ => want_commit r v t a | _ => true end   (* refusing is fine; rows must be the right ones *)
-         end
-     if revdb_denotes r v then want_commit r v t a
-    else match (norm_base r (fst v), snd v) with
-         | (BBranch b, []) =>                         (* dirty branch: `db/branch` is the branch's working set *)
-           match branch_working r b with
-           | Some w => match assoc t (d_schema w) with
-                       | Some cols => ans_eqb a (ARows cols (rows_of t (d_data w)))
-                       | None => is_error a
-                       end
-           | None => is_error a
-           end
-         | _ => match a with ARows _ _ | AHist _ _ => want_commit r v t a | _ => true end   (* refusing is fine; rows must be the right ones *)
-         end
-:    if revdb_denotes r v then want_commit r v t a
-    else match (norm_base r (fst v), snd v) with
-         | (BBranch b, []) =>                         (* dirty branch: `db/branch` is the branch's working set *)
-           match branch_working r b with
-           | Some w => match assoc t (d_schema w) with
-                       | Some cols => ans_eqb a (ARows cols (rows_of t (d_data w)))
-                       | None => is_error a
-                       end
-           | None => is_error a
-           end
-         | _ => match a with ARows _ _ | AHist _ _ => want_commit r v t a | _ => true end   (* refusing is fine; rows must be the right ones *)
-         end
-     if revdb_denotes r v then want_commit r v t a
-    else match (norm_base r (fst v), snd v) with
-         | (BBranch b, []) =>                         (* dirty branch: `db/branch` is the branch's working set *)
-           match branch_working r b with
-           | Some w => match assoc t (d_schema w) with
-                       | Some cols => ans_eqb a (ARows cols (rows_of t (d_data w)))
-                       | None => is_error a
-                       end
-           | None => is_error a
-           end
-         | _ => match a with ARows _ _ | AHist _ _ => want_commit r v t a | _ => true end   (* refusing is fine; rows must be the right ones *)
-         end
-a    if revdb_denotes r v then want_commit r v t a
-    else match (norm_base r (fst v), snd v) with
-         | (BBranch b, []) =>                         (* dirty branch: `db/branch` is the branch's working set *)
-           match branch_working r b with
-           | Some w => match assoc t (d_schema w) with
-                       | Some cols => ans_eqb a (ARows cols (rows_of t (d_data w)))
-                       | None => is_error a
-                       end
-           | None => is_error a
-           end
-         | _ => match a with ARows _ _ | AHist _ _ => want_commit r v t a | _ => true end   (* refusing is fine; rows must be the right ones *)
-         end
-n    if revdb_denotes r v then want_commit r v t a
-    else match (norm_base r (fst v), snd v) with
-         | (BBranch b, []) =>                         (* dirty branch: `db/branch` is the branch's working set *)
-           match branch_working r b with
-           | Some w => match assoc t (d_schema w) with
-                       | Some cols => ans_eqb a (ARows cols (rows_of t (d_data w)))
-                       | None => is_error a
-                       end
-           | None => is_error a
-           end
-         | _ => match a with ARows _ _ | AHist _ _ => want_commit r v t a | _ => true end   (* refusing is fine; rows must be the right ones *)
-         end
-s    if revdb_denotes r v then want_commit r v t a
-    else match (norm_base r (fst v), snd v) with
-         | (BBranch b, []) =>                         (* dirty branch: `db/branch` is the branch's working set *)
-           match branch_working r b with
-           | Some w => match assoc t (d_schema w) with
-                       | Some cols => ans_eqb a (ARows cols (rows_of t (d_data w)))
-                       | None => is_error a
-                       end
-           | None => is_error a
-           end
-         | _ => match a with ARows _ _ | AHist _ _ => want_commit r v t a | _ => true end   (* refusing is fine; rows must be the right ones *)
-         end
-)    if revdb_denotes r v then want_commit r v t a
-    else match (norm_base r (fst v), snd v) with
-         | (BBranch b, []) =>                         (* dirty branch: `db/branch` is the branch's working set *)
-           match branch_working r b with
-           | Some w => match assoc t (d_schema w) with
-                       | Some cols => ans_eqb a (ARows cols (rows_of t (d_data w)))
-                       | None => is_error a
-                       end
-           | None => is_error a
-           end
-         | _ => match a with ARows _ _ | AHist _ _ => want_commit r v t a | _ => true end   (* refusing is fine; rows must be the right ones *)
-         end
-     if revdb_denotes r v then want_commit r v t a
-    else match (norm_base r (fst v), snd v) with
-         | (BBranch b, []) =>                         (* dirty branch: `db/branch` is the branch's working set *)
-           match branch_working r b with
-           | Some w => match assoc t (d_schema w) with
-                       | Some cols => ans_eqb a (ARows cols (rows_of t (d_data w)))
-                       | None => is_error a
-                       end
-           | None => is_error a
-           end
-         | _ => match a with ARows _ _ | AHist _ _ => want_commit r v t a | _ => true end   (* refusing is fine; rows must be the right ones *)
-         end
-:    if revdb_denotes r v then want_commit r v t a
-    else match (norm_base r (fst v), snd v) with
-         | (BBranch b, []) =>                         (* dirty branch: `db/branch` is the branch's working set *)
-           match branch_working r b with
-           | Some w => match assoc t (d_schema w) with
-                       | Some cols => ans_eqb a (ARows cols (rows_of t (d_data w)))
-                       | None => is_error a
-                       end
-           | None => is_error a
-           end
-         | _ => match a with ARows _ _ | AHist _ _ => want_commit r v t a | _ => true end   (* refusing is fine; rows must be the right ones *)
-         end
-     if revdb_denotes r v then want_commit r v t a
-    else match (norm_base r (fst v), snd v) with
-         | (BBranch b, []) =>                         (* dirty branch: `db/branch` is the branch's working set *)
-           match branch_working r b with
-           | Some w => match assoc t (d_schema w) with
-                       | Some cols => ans_eqb a (ARows cols (rows_of t (d_data w)))
-                       | None => is_error a
-                       end
-           | None => is_error a
-           end
-         | _ => match a with ARows _ _ | AHist _ _ => want_commit r v t a | _ => true end   (* refusing is fine; rows must be the right ones *)
-         end
-b    if revdb_denotes r v then want_commit r v t a
-    else match (norm_base r (fst v), snd v) with
-         | (BBranch b, []) =>                         (* dirty branch: `db/branch` is the branch's working set *)
-           match branch_working r b with
-           | Some w => match assoc t (d_schema w) with
-                       | Some cols => ans_eqb a (ARows cols (rows_of t (d_data w)))
-                       | None => is_error a
-                       end
-           | None => is_error a
-           end
-         | _ => match a with ARows _ _ | AHist _ _ => want_commit r v t a | _ => true end   (* refusing is fine; rows must be the right ones *)
-         end
-o    if revdb_denotes r v then want_commit r v t a
-    else match (norm_base r (fst v), snd v) with
-         | (BBranch b, []) =>                         (* dirty branch: `db/branch` is the branch's working set *)
-           match branch_working r b with
-           | Some w => match assoc t (d_schema w) with
-                       | Some cols => ans_eqb a (ARows cols (rows_of t (d_data w)))
-                       | None => is_error a
-                       end
-           | None => is_error a
-           end
-         | _ => match a with ARows _ _ | AHist _ _ => want_commit r v t a | _ => true end   (* refusing is fine; rows must be the right ones *)
-         end
-o    if revdb_denotes r v then want_commit r v t a
-    else match (norm_base r (fst v), snd v) with
-         | (BBranch b, []) =>                         (* dirty branch: `db/branch` is the branch's working set *)
-           match branch_working r b with
-           | Some w => match assoc t (d_schema w) with
-                       | Some cols => ans_eqb a (ARows cols (rows_of t (d_data w)))
-                       | None => is_error a
-                       end
-           | None => is_error a
-           end
-         | _ => match a with ARows _ _ | AHist _ _ => want_commit r v t a | _ => true end   (* refusing is fine; rows must be the right ones *)
-         end
-l    if revdb_denotes r v then want_commit r v t a
-    else match (norm_base r (fst v), snd v) with
-         | (BBranch b, []) =>                         (* dirty branch: `db/branch` is the branch's working set *)
-           match branch_working r b with
-           | Some w => match assoc t (d_schema w) with
-                       | Some cols => ans_eqb a (ARows cols (rows_of t (d_data w)))
-                       | None => is_error a
-                       end
-           | None => is_error a
-           end
-         | _ => match a with ARows _ _ | AHist _ _ => want_commit r v t a | _ => true end   (* refusing is fine; rows must be the right ones *)
-         end
-     if revdb_denotes r v then want_commit r v t a
-    else match (norm_base r (fst v), snd v) with
-         | (BBranch b, []) =>                         (* dirty branch: `db/branch` is the branch's working set *)
-           match branch_working r b with
-           | Some w => match assoc t (d_schema w) with
-                       | Some cols => ans_eqb a (ARows cols (rows_of t (d_data w)))
-                       | None => is_error a
-                       end
-           | None => is_error a
-           end
-         | _ => match a with ARows _ _ | AHist _ _ => want_commit r v t a | _ => true end   (* refusing is fine; rows must be the right ones *)
-         end
-:    if revdb_denotes r v then want_commit r v t a
-    else match (norm_base r (fst v), snd v) with
-         | (BBranch b, []) =>                         (* dirty branch: `db/branch` is the branch's working set *)
-           match branch_working r b with
-           | Some w => match assoc t (d_schema w) with
-                       | Some cols => ans_eqb a (ARows cols (rows_of t (d_data w)))
-                       | None => is_error a
-                       end
-           | None => is_error a
-           end
-         | _ => match a with ARows _ _ | AHist _ _ => want_commit r v t a | _ => true end   (* refusing is fine; rows must be the right ones *)
-         end
-=    if revdb_denotes r v then want_commit r v t a
-    else match (norm_base r (fst v), snd v) with
-         | (BBranch b, []) =>                         (* dirty branch: `db/branch` is the branch's working set *)
-           match branch_working r b with
-           | Some w => match assoc t (d_schema w) with
-                       | Some cols => ans_eqb a (ARows cols (rows_of t (d_data w)))
-                       | None => is_error a
-                       end
-           | None => is_error a
-           end
-         | _ => match a with ARows _ _ | AHist _ _ => want_commit r v t a | _ => true end   (* refusing is fine; rows must be the right ones *)
-         end
-
-    if revdb_denotes r v then want_commit r v t a
-    else match (norm_base r (fst v), snd v) with
-         | (BBranch b, []) =>                         (* dirty branch: `db/branch` is the branch's working set *)
-           match branch_working r b with
-           | Some w => match assoc t (d_schema w) with
-                       | Some cols => ans_eqb a (ARows cols (rows_of t (d_data w)))
-                       | None => is_error a
-                       end
-           | None => is_error a
-           end
-         | _ => match a with ARows _ _ | AHist _ _ => want_commit r v t a | _ => true end   (* refusing is fine; rows must be the right ones *)
-         end
-     if revdb_denotes r v then want_commit r v t a
-    else match (norm_base r (fst v), snd v) with
-         | (BBranch b, []) =>                         (* dirty branch: `db/branch` is the branch's working set *)
-           match branch_working r b with
-           | Some w => match assoc t (d_schema w) with
-                       | Some cols => ans_eqb a (ARows cols (rows_of t (d_data w)))
-                       | None => is_error a
-                       end
-           | None => is_error a
-           end
-         | _ => match a with ARows _ _ | AHist _ _ => want_commit r v t a | _ => true end   (* refusing is fine; rows must be the right ones *)
-         end
-     if revdb_denotes r v then want_commit r v t a
-    else match (norm_base r (fst v), snd v) with
-         | (BBranch b, []) =>                         (* dirty branch: `db/branch` is the branch's working set *)
-           match branch_working r b with
-           | Some w => match assoc t (d_schema w) with
-                       | Some cols => ans_eqb a (ARows cols (rows_of t (d_data w)))
-                       | None => is_error a
-                       end
-           | None => is_error a
-           end
-         | _ => match a with ARows _ _ | AHist _ _ => want_commit r v t a | _ => true end   (* refusing is fine; rows must be the right ones *)
-         end
-m    if revdb_denotes r v then want_commit r v t a
-    else match (norm_base r (fst v), snd v) with
-         | (BBranch b, []) =>                         (* dirty branch: `db/branch` is the branch's working set *)
-           match branch_working r b with
-           | Some w => match assoc t (d_schema w) with
-                       | Some cols => ans_eqb a (ARows cols (rows_of t (d_data w)))
-                       | None => is_error a
-                       end
-           | None => is_error a
-           end
-         | _ => match a with ARows _ _ | AHist _ _ => want_commit r v t a | _ => true end   (* refusing is fine; rows must be the right ones *)
-         end
-a    if revdb_denotes r v then want_commit r v t a
-    else match (norm_base r (fst v), snd v) with
-         | (BBranch b, []) =>                         (* dirty branch: `db/branch` is the branch's working set *)
-           match branch_working r b with
-           | Some w => match assoc t (d_schema w) with
-                       | Some cols => ans_eqb a (ARows cols (rows_of t (d_data w)))
-                       | None => is_error a
-                       end
-           | None => is_error a
-           end
-         | _ => match a with ARows _ _ | AHist _ _ => want_commit r v t a | _ => true end   (* refusing is fine; rows must be the right ones *)
-         end
-t    if revdb_denotes r v then want_commit r v t a
-    else match (norm_base r (fst v), snd v) with
-         | (BBranch b, []) =>                         (* dirty branch: `db/branch` is the branch's working set *)
-           match branch_working r b with
-           | Some w => match assoc t (d_schema w) with
-                       | Some cols => ans_eqb a (ARows cols (rows_of t (d_data w)))
-                       | None => is_error a
-                       end
-           | None => is_error a
-           end
-         | _ => match a with ARows _ _ | AHist _ _ => want_commit r v t a | _ => true end   (* refusing is fine; rows must be the right ones *)
-         end
-c    if revdb_denotes r v then want_commit r v t a
-    else match (norm_base r (fst v), snd v) with
-         | (BBranch b, []) =>                         (* dirty branch: `db/branch` is the branch's working set *)
-           match branch_working r b with
-           | Some w => match assoc t (d_schema w) with
-                       | Some cols => ans_eqb a (ARows cols (rows_of t (d_data w)))
-                       | None => is_error a
-                       end
-           | None => is_error a
-           end
-         | _ => match a with ARows _ _ | AHist _ _ => want_commit r v t a | _ => true end   (* refusing is fine; rows must be the right ones *)
-         end
-h    if revdb_denotes r v then want_commit r v t a
-    else match (norm_base r (fst v), snd v) with
-         | (BBranch b, []) =>                         (* dirty branch: `db/branch` is the branch's working set *)
-           match branch_working r b with
-           | Some w => match assoc t (d_schema w) with
-                       | Some cols => ans_eqb a (ARows cols (rows_of t (d_data w)))
-                       | None => is_error a
-                       end
-           | None => is_error a
-           end
-         | _ => match a with ARows _ _ | AHist _ _ => want_commit r v t a | _ => true end   (* refusing is fine; rows must be the right ones *)
-         end
-     if revdb_denotes r v then want_commit r v t a
-    else match (norm_base r (fst v), snd v) with
-         | (BBranch b, []) =>                         (* dirty branch: `db/branch` is the branch's working set *)
-           match branch_working r b with
-           | Some w => match assoc t (d_schema w) with
-                       | Some cols => ans_eqb a (ARows cols (rows_of t (d_data w)))
-                       | None => is_error a
-                       end
-           | None => is_error a
-           end
-         | _ => match a with ARows _ _ | AHist _ _ => want_commit r v t a | _ => true end   (* refusing is fine; rows must be the right ones *)
-         end
-q    if revdb_denotes r v then want_commit r v t a
-    else match (norm_base r (fst v), snd v) with
-         | (BBranch b, []) =>                         (* dirty branch: `db/branch` is the branch's working set *)
-           match branch_working r b with
-           | Some w => match assoc t (d_schema w) with
-                       | Some cols => ans_eqb a (ARows cols (rows_of t (d_data w)))
-                       | None => is_error a
-                       end
-           | None => is_error a
-           end
-         | _ => match a with ARows _ _ | AHist _ _ => want_commit r v t a | _ => true end   (* refusing is fine; rows must be the right ones *)
-         end
-     if revdb_denotes r v then want_commit r v t a
-    else match (norm_base r (fst v), snd v) with
-         | (BBranch b, []) =>                         (* dirty branch: `db/branch` is the branch's working set *)
-           match branch_working r b with
-           | Some w => match assoc t (d_schema w) with
-                       | Some cols => ans_eqb a (ARows cols (rows_of t (d_data w)))
-                       | None => is_error a
-                       end
-           | None => is_error a
-           end
-         | _ => match a with ARows _ _ | AHist _ _ => want_commit r v t a | _ => true end   (* refusing is fine; rows must be the right ones *)
-         end
-w    if revdb_denotes r v then want_commit r v t a
-    else match (norm_base r (fst v), snd v) with
-         | (BBranch b, []) =>                         (* dirty branch: `db/branch` is the branch's working set *)
-           match branch_working r b with
-           | Some w => match assoc t (d_schema w) with
-                       | Some cols => ans_eqb a (ARows cols (rows_of t (d_data w)))
-                       | None => is_error a
-                       end
-           | None => is_error a
-           end
-         | _ => match a with ARows _ _ | AHist _ _ => want_commit r v t a | _ => true end   (* refusing is fine; rows must be the right ones *)
-         end
-i    if revdb_denotes r v then want_commit r v t a
-    else match (norm_base r (fst v), snd v) with
-         | (BBranch b, []) =>                         (* dirty branch: `db/branch` is the branch's working set *)
-           match branch_working r b with
-           | Some w => match assoc t (d_schema w) with
-                       | Some cols => ans_eqb a (ARows cols (rows_of t (d_data w)))
-                       | None => is_error a
-                       end
-           | None => is_error a
-           end
-         | _ => match a with ARows _ _ | AHist _ _ => want_commit r v t a | _ => true end   (* refusing is fine; rows must be the right ones *)
-         end
-t    if revdb_denotes r v then want_commit r v t a
-    else match (norm_base r (fst v), snd v) with
-         | (BBranch b, []) =>                         (* dirty branch: `db/branch` is the branch's working set *)
-           match branch_working r b with
-           | Some w => match assoc t (d_schema w) with
-                       | Some cols => ans_eqb a (ARows cols (rows_of t (d_data w)))
-                       | None => is_error a
-                       end
-           | None => is_error a
-           end
-         | _ => match a with ARows _ _ | AHist _ _ => want_commit r v t a | _ => true end   (* refusing is fine; rows must be the right ones *)
-         end
-h    if revdb_denotes r v then want_commit r v t a
-    else match (norm_base r (fst v), snd v) with
-         | (BBranch b, []) =>                         (* dirty branch: `db/branch` is the branch's working set *)
-           match branch_working r b with
-           | Some w => match assoc t (d_schema w) with
-                       | Some cols => ans_eqb a (ARows cols (rows_of t (d_data w)))
-                       | None => is_error a
-                       end
-           | None => is_error a
-           end
-         | _ => match a with ARows _ _ | AHist _ _ => want_commit r v t a | _ => true end   (* refusing is fine; rows must be the right ones *)
-         end
-
-    if revdb_denotes r v then want_commit r v t a
-    else match (norm_base r (fst v), snd v) with
-         | (BBranch b, []) =>                         (* dirty branch: `db/branch` is the branch's working set *)
-           match branch_working r b with
-           | Some w => match assoc t (d_schema w) with
-                       | Some cols => ans_eqb a (ARows cols (rows_of t (d_data w)))
-                       | None => is_error a
-                       end
-           | None => is_error a
-           end
-         | _ => match a with ARows _ _ | AHist _ _ => want_commit r v t a | _ => true end   (* refusing is fine; rows must be the right ones *)
-         end
-     if revdb_denotes r v then want_commit r v t a
-    else match (norm_base r (fst v), snd v) with
-         | (BBranch b, []) =>                         (* dirty branch: `db/branch` is the branch's working set *)
-           match branch_working r b with
-           | Some w => match assoc t (d_schema w) with
-                       | Some cols => ans_eqb a (ARows cols (rows_of t (d_data w)))
-                       | None => is_error a
-                       end
-           | None => is_error a
-           end
-         | _ => match a with ARows _ _ | AHist _ _ => want_commit r v t a | _ => true end   (* refusing is fine; rows must be the right ones *)
-         end
-     if revdb_denotes r v then want_commit r v t a
-    else match (norm_base r (fst v), snd v) with
-         | (BBranch b, []) =>                         (* dirty branch: `db/branch` is the branch's working set *)
-           match branch_working r b with
-           | Some w => match assoc t (d_schema w) with
-                       | Some cols => ans_eqb a (ARows cols (rows_of t (d_data w)))
-                       | None => is_error a
-                       end
-           | None => is_error a
-           end
-         | _ => match a with ARows _ _ | AHist _ _ => want_commit r v t a | _ => true end   (* refusing is fine; rows must be the right ones *)
-         end
-|    if revdb_denotes r v then want_commit r v t a
-    else match (norm_base r (fst v), snd v) with
-         | (BBranch b, []) =>                         (* dirty branch: `db/branch` is the branch's working set *)
-           match branch_working r b with
-           | Some w => match assoc t (d_schema w) with
-                       | Some cols => ans_eqb a (ARows cols (rows_of t (d_data w)))
-                       | None => is_error a
-                       end
-           | None => is_error a
-           end
-         | _ => match a with ARows _ _ | AHist _ _ => want_commit r v t a | _ => true end   (* refusing is fine; rows must be the right ones *)
-         end
-     if revdb_denotes r v then want_commit r v t a
-    else match (norm_base r (fst v), snd v) with
-         | (BBranch b, []) =>                         (* dirty branch: `db/branch` is the branch's working set *)
-           match branch_working r b with
-           | Some w => match assoc t (d_schema w) with
-                       | Some cols => ans_eqb a (ARows cols (rows_of t (d_data w)))
-                       | None => is_error a
-                       end
-           | None => is_error a
-           end
-         | _ => match a with ARows _ _ | AHist _ _ => want_commit r v t a | _ => true end   (* refusing is fine; rows must be the right ones *)
-         end
-Q    if revdb_denotes r v then want_commit r v t a
-    else match (norm_base r (fst v), snd v) with
-         | (BBranch b, []) =>                         (* dirty branch: `db/branch` is the branch's working set *)
-           match branch_working r b with
-           | Some w => match assoc t (d_schema w) with
-                       | Some cols => ans_eqb a (ARows cols (rows_of t (d_data w)))
-                       | None => is_error a
-                       end
-           | None => is_error a
-           end
-         | _ => match a with ARows _ _ | AHist _ _ => want_commit r v t a | _ => true end   (* refusing is fine; rows must be the right ones *)
-         end
-A    if revdb_denotes r v then want_commit r v t a
-    else match (norm_base r (fst v), snd v) with
-         | (BBranch b, []) =>                         (* dirty branch: `db/branch` is the branch's working set *)
-           match branch_working r b with
-           | Some w => match assoc t (d_schema w) with
-                       | Some cols => ans_eqb a (ARows cols (rows_of t (d_data w)))
-                       | None => is_error a
-                       end
-           | None => is_error a
-           end
-         | _ => match a with ARows _ _ | AHist _ _ => want_commit r v t a | _ => true end   (* refusing is fine; rows must be the right ones *)
-         end
-s    if revdb_denotes r v then want_commit r v t a
-    else match (norm_base r (fst v), snd v) with
-         | (BBranch b, []) =>                         (* dirty branch: `db/branch` is the branch's working set *)
-           match branch_working r b with
-           | Some w => match assoc t (d_schema w) with
-                       | Some cols => ans_eqb a (ARows cols (rows_of t (d_data w)))
-                       | None => is_error a
-                       end
-           | None => is_error a
-           end
-         | _ => match a with ARows _ _ | AHist _ _ => want_commit r v t a | _ => true end   (* refusing is fine; rows must be the right ones *)
-         end
-O    if revdb_denotes r v then want_commit r v t a
-    else match (norm_base r (fst v), snd v) with
-         | (BBranch b, []) =>                         (* dirty branch: `db/branch` is the branch's working set *)
-           match branch_working r b with
-           | Some w => match assoc t (d_schema w) with
-                       | Some cols => ans_eqb a (ARows cols (rows_of t (d_data w)))
-                       | None => is_error a
-                       end
-           | None => is_error a
-           end
-         | _ => match a with ARows _ _ | AHist _ _ => want_commit r v t a | _ => true end   (* refusing is fine; rows must be the right ones *)
-         end
-f    if revdb_denotes r v then want_commit r v t a
-    else match (norm_base r (fst v), snd v) with
-         | (BBranch b, []) =>                         (* dirty branch: `db/branch` is the branch's working set *)
-           match branch_working r b with
-           | Some w => match assoc t (d_schema w) with
-                       | Some cols => ans_eqb a (ARows cols (rows_of t (d_data w)))
-                       | None => is_error a
-                       end
-           | None => is_error a
-           end
-         | _ => match a with ARows _ _ | AHist _ _ => want_commit r v t a | _ => true end   (* refusing is fine; rows must be the right ones *)
-         end
-     if revdb_denotes r v then want_commit r v t a
-    else match (norm_base r (fst v), snd v) with
-         | (BBranch b, []) =>                         (* dirty branch: `db/branch` is the branch's working set *)
-           match branch_working r b with
-           | Some w => match assoc t (d_schema w) with
-                       | Some cols => ans_eqb a (ARows cols (rows_of t (d_data w)))
-                       | None => is_error a
-                       end
-           | None => is_error a
-           end
-         | _ => match a with ARows _ _ | AHist _ _ => want_commit r v t a | _ => true end   (* refusing is fine; rows must be the right ones *)
-         end
-v    if revdb_denotes r v then want_commit r v t a
-    else match (norm_base r (fst v), snd v) with
-         | (BBranch b, []) =>                         (* dirty branch: `db/branch` is the branch's working set *)
-           match branch_working r b with
-           | Some w => match assoc t (d_schema w) with
-                       | Some cols => ans_eqb a (ARows cols (rows_of t (d_data w)))
-                       | None => is_error a
-                       end
-           | None => is_error a
-           end
-         | _ => match a with ARows _ _ | AHist _ _ => want_commit r v t a | _ => true end   (* refusing is fine; rows must be the right ones *)
-         end
-     if revdb_denotes r v then want_commit r v t a
-    else match (norm_base r (fst v), snd v) with
-         | (BBranch b, []) =>                         (* dirty branch: `db/branch` is the branch's working set *)
-           match branch_working r b with
-           | Some w => match assoc t (d_schema w) with
-                       | Some cols => ans_eqb a (ARows cols (rows_of t (d_data w)))
-                       | None => is_error a
-                       end
-           | None => is_error a
-           end
-         | _ => match a with ARows _ _ | AHist _ _ => want_commit r v t a | _ => true end   (* refusing is fine; rows must be the right ones *)
-         end
-t    if revdb_denotes r v then want_commit r v t a
-    else match (norm_base r (fst v), snd v) with
-         | (BBranch b, []) =>                         (* dirty branch: `db/branch` is the branch's working set *)
-           match branch_working r b with
-           | Some w => match assoc t (d_schema w) with
-                       | Some cols => ans_eqb a (ARows cols (rows_of t (d_data w)))
-                       | None => is_error a
-                       end
-           | None => is_error a
-           end
-         | _ => match a with ARows _ _ | AHist _ _ => want_commit r v t a | _ => true end   (* refusing is fine; rows must be the right ones *)
-         end
-     if revdb_denotes r v then want_commit r v t a
-    else match (norm_base r (fst v), snd v) with
-         | (BBranch b, []) =>                         (* dirty branch: `db/branch` is the branch's working set *)
-           match branch_working r b with
-           | Some w => match assoc t (d_schema w) with
-                       | Some cols => ans_eqb a (ARows cols (rows_of t (d_data w)))
-                       | None => is_error a
-                       end
-           | None => is_error a
-           end
-         | _ => match a with ARows _ _ | AHist _ _ => want_commit r v t a | _ => true end   (* refusing is fine; rows must be the right ones *)
-         end
-=    if revdb_denotes r v then want_commit r v t a
-    else match (norm_base r (fst v), snd v) with
-         | (BBranch b, []) =>                         (* dirty branch: `db/branch` is the branch's working set *)
-           match branch_working r b with
-           | Some w => match assoc t (d_schema w) with
-                       | Some cols => ans_eqb a (ARows cols (rows_of t (d_data w)))
-                       | None => is_error a
-                       end
-           | None => is_error a
-           end
-         | _ => match a with ARows _ _ | AHist _ _ => want_commit r v t a | _ => true end   (* refusing is fine; rows must be the right ones *)
-         end
->    if revdb_denotes r v then want_commit r v t a
-    else match (norm_base r (fst v), snd v) with
-         | (BBranch b, []) =>                         (* dirty branch: `db/branch` is the branch's working set *)
-           match branch_working r b with
-           | Some w => match assoc t (d_schema w) with
-                       | Some cols => ans_eqb a (ARows cols (rows_of t (d_data w)))
-                       | None => is_error a
-                       end
-           | None => is_error a
-           end
-         | _ => match a with ARows _ _ | AHist _ _ => want_commit r v t a | _ => true end   (* refusing is fine; rows must be the right ones *)
-         end
-     if revdb_denotes r v then want_commit r v t a
-    else match (norm_base r (fst v), snd v) with
-         | (BBranch b, []) =>                         (* dirty branch: `db/branch` is the branch's working set *)
-           match branch_working r b with
-           | Some w => match assoc t (d_schema w) with
-                       | Some cols => ans_eqb a (ARows cols (rows_of t (d_data w)))
-                       | None => is_error a
-                       end
-           | None => is_error a
-           end
-         | _ => match a with ARows _ _ | AHist _ _ => want_commit r v t a | _ => true end   (* refusing is fine; rows must be the right ones *)
-         end
-w    if revdb_denotes r v then want_commit r v t a
-    else match (norm_base r (fst v), snd v) with
-         | (BBranch b, []) =>                         (* dirty branch: `db/branch` is the branch's working set *)
-           match branch_working r b with
-           | Some w => match assoc t (d_schema w) with
-                       | Some cols => ans_eqb a (ARows cols (rows_of t (d_data w)))
-                       | None => is_error a
-                       end
-           | None => is_error a
-           end
-         | _ => match a with ARows _ _ | AHist _ _ => want_commit r v t a | _ => true end   (* refusing is fine; rows must be the right ones *)
-         end
-a    if revdb_denotes r v then want_commit r v t a
-    else match (norm_base r (fst v), snd v) with
-         | (BBranch b, []) =>                         (* dirty branch: `db/branch` is the branch's working set *)
-           match branch_working r b with
-           | Some w => match assoc t (d_schema w) with
-                       | Some cols => ans_eqb a (ARows cols (rows_of t (d_data w)))
-                       | None => is_error a
-                       end
-           | None => is_error a
-           end
-         | _ => match a with ARows _ _ | AHist _ _ => want_commit r v t a | _ => true end   (* refusing is fine; rows must be the right ones *)
-         end
-n    if revdb_denotes r v then want_commit r v t a
-    else match (norm_base r (fst v), snd v) with
-         | (BBranch b, []) =>                         (* dirty branch: `db/branch` is the branch's working set *)
-           match branch_working r b with
-           | Some w => match assoc t (d_schema w) with
-                       | Some cols => ans_eqb a (ARows cols (rows_of t (d_data w)))
-                       | None => is_error a
-                       end
-           | None => is_error a
-           end
-         | _ => match a with ARows _ _ | AHist _ _ => want_commit r v t a | _ => true end   (* refusing is fine; rows must be the right ones *)
-         end
-t    if revdb_denotes r v then want_commit r v t a
-    else match (norm_base r (fst v), snd v) with
-         | (BBranch b, []) =>                         (* dirty branch: `db/branch` is the branch's working set *)
-           match branch_working r b with
-           | Some w => match assoc t (d_schema w) with
-                       | Some cols => ans_eqb a (ARows cols (rows_of t (d_data w)))
-                       | None => is_error a
-                       end
-           | None => is_error a
-           end
-         | _ => match a with ARows _ _ | AHist _ _ => want_commit r v t a | _ => true end   (* refusing is fine; rows must be the right ones *)
-         end
-_    if revdb_denotes r v then want_commit r v t a
-    else match (norm_base r (fst v), snd v) with
-         | (BBranch b, []) =>                         (* dirty branch: `db/branch` is the branch's working set *)
-           match branch_working r b with
-           | Some w => match assoc t (d_schema w) with
-                       | Some cols => ans_eqb a (ARows cols (rows_of t (d_data w)))
-                       | None => is_error a
-                       end
-           | None => is_error a
-           end
-         | _ => match a with ARows _ _ | AHist _ _ => want_commit r v t a | _ => true end   (* refusing is fine; rows must be the right ones *)
-         end
-c    if revdb_denotes r v then want_commit r v t a
-    else match (norm_base r (fst v), snd v) with
-         | (BBranch b, []) =>                         (* dirty branch: `db/branch` is the branch's working set *)
-           match branch_working r b with
-           | Some w => match assoc t (d_schema w) with
-                       | Some cols => ans_eqb a (ARows cols (rows_of t (d_data w)))
-                       | None => is_error a
-                       end
-           | None => is_error a
-           end
-         | _ => match a with ARows _ _ | AHist _ _ => want_commit r v t a | _ => true end   (* refusing is fine; rows must be the right ones *)
-         end
-o    if revdb_denotes r v then want_commit r v t a
-    else match (norm_base r (fst v), snd v) with
-         | (BBranch b, []) =>                         (* dirty branch: `db/branch` is the branch's working set *)
-           match branch_working r b with
-           | Some w => match assoc t (d_schema w) with
-                       | Some cols => ans_eqb a (ARows cols (rows_of t (d_data w)))
-                       | None => is_error a
-                       end
-           | None => is_error a
-           end
-         | _ => match a with ARows _ _ | AHist _ _ => want_commit r v t a | _ => true end   (* refusing is fine; rows must be the right ones *)
-         end
-m    if revdb_denotes r v then want_commit r v t a
-    else match (norm_base r (fst v), snd v) with
-         | (BBranch b, []) =>                         (* dirty branch: `db/branch` is the branch's working set *)
-           match branch_working r b with
-           | Some w => match assoc t (d_schema w) with
-                       | Some cols => ans_eqb a (ARows cols (rows_of t (d_data w)))
-                       | None => is_error a
-                       end
-           | None => is_error a
-           end
-         | _ => match a with ARows _ _ | AHist _ _ => want_commit r v t a | _ => true end   (* refusing is fine; rows must be the right ones *)
-         end
-m    if revdb_denotes r v then want_commit r v t a
-    else match (norm_base r (fst v), snd v) with
-         | (BBranch b, []) =>                         (* dirty branch: `db/branch` is the branch's working set *)
-           match branch_working r b with
-           | Some w => match assoc t (d_schema w) with
-                       | Some cols => ans_eqb a (ARows cols (rows_of t (d_data w)))
-                       | None => is_error a
-                       end
-           | None => is_error a
-           end
-         | _ => match a with ARows _ _ | AHist _ _ => want_commit r v t a | _ => true end   (* refusing is fine; rows must be the right ones *)
-         end
-i    if revdb_denotes r v then want_commit r v t a
-    else match (norm_base r (fst v), snd v) with
-         | (BBranch b, []) =>                         (* dirty branch: `db/branch` is the branch's working set *)
-           match branch_working r b with
-           | Some w => match assoc t (d_schema w) with
-                       | Some cols => ans_eqb a (ARows cols (rows_of t (d_data w)))
-                       | None => is_error a
-                       end
-           | None => is_error a
-           end
-         | _ => match a with ARows _ _ | AHist _ _ => want_commit r v t a | _ => true end   (* refusing is fine; rows must be the right ones *)
-         end
-t    if revdb_denotes r v then want_commit r v t a
-    else match (norm_base r (fst v), snd v) with
-         | (BBranch b, []) =>                         (* dirty branch: `db/branch` is the branch's working set *)
-           match branch_working r b with
-           | Some w => match assoc t (d_schema w) with
-                       | Some cols => ans_eqb a (ARows cols (rows_of t (d_data w)))
-                       | None => is_error a
-                       end
-           | None => is_error a
-           end
-         | _ => match a with ARows _ _ | AHist _ _ => want_commit r v t a | _ => true end   (* refusing is fine; rows must be the right ones *)
-         end
-     if revdb_denotes r v then want_commit r v t a
-    else match (norm_base r (fst v), snd v) with
-         | (BBranch b, []) =>                         (* dirty branch: `db/branch` is the branch's working set *)
-           match branch_working r b with
-           | Some w => match assoc t (d_schema w) with
-                       | Some cols => ans_eqb a (ARows cols (rows_of t (d_data w)))
-                       | None => is_error a
-                       end
-           | None => is_error a
-           end
-         | _ => match a with ARows _ _ | AHist _ _ => want_commit r v t a | _ => true end   (* refusing is fine; rows must be the right ones *)
-         end
-r    if revdb_denotes r v then want_commit r v t a
-    else match (norm_base r (fst v), snd v) with
-         | (BBranch b, []) =>                         (* dirty branch: `db/branch` is the branch's working set *)
-           match branch_working r b with
-           | Some w => match assoc t (d_schema w) with
-                       | Some cols => ans_eqb a (ARows cols (rows_of t (d_data w)))
-                       | None => is_error a
-                       end
-           | None => is_error a
-           end
-         | _ => match a with ARows _ _ | AHist _ _ => want_commit r v t a | _ => true end   (* refusing is fine; rows must be the right ones *)
-         end
-     if revdb_denotes r v then want_commit r v t a
-    else match (norm_base r (fst v), snd v) with
-         | (BBranch b, []) =>                         (* dirty branch: `db/branch` is the branch's working set *)
-           match branch_working r b with
-           | Some w => match assoc t (d_schema w) with
-                       | Some cols => ans_eqb a (ARows cols (rows_of t (d_data w)))
-                       | None => is_error a
-                       end
-           | None => is_error a
-           end
-         | _ => match a with ARows _ _ | AHist _ _ => want_commit r v t a | _ => true end   (* refusing is fine; rows must be the right ones *)
-         end
-v    if revdb_denotes r v then want_commit r v t a
-    else match (norm_base r (fst v), snd v) with
-         | (BBranch b, []) =>                         (* dirty branch: `db/branch` is the branch's working set *)
-           match branch_working r b with
-           | Some w => match assoc t (d_schema w) with
-                       | Some cols => ans_eqb a (ARows cols (rows_of t (d_data w)))
-                       | None => is_error a
-                       end
-           | None => is_error a
-           end
-         | _ => match a with ARows _ _ | AHist _ _ => want_commit r v t a | _ => true end   (* refusing is fine; rows must be the right ones *)
-         end
-     if revdb_denotes r v then want_commit r v t a
-    else match (norm_base r (fst v), snd v) with
-         | (BBranch b, []) =>                         (* dirty branch: `db/branch` is the branch's working set *)
-           match branch_working r b with
-           | Some w => match assoc t (d_schema w) with
-                       | Some cols => ans_eqb a (ARows cols (rows_of t (d_data w)))
-                       | None => is_error a
-                       end
-           | None => is_error a
-           end
-         | _ => match a with ARows _ _ | AHist _ _ => want_commit r v t a | _ => true end   (* refusing is fine; rows must be the right ones *)
-         end
-t    if revdb_denotes r v then want_commit r v t a
-    else match (norm_base r (fst v), snd v) with
-         | (BBranch b, []) =>                         (* dirty branch: `db/branch` is the branch's working set *)
-           match branch_working r b with
-           | Some w => match assoc t (d_schema w) with
-                       | Some cols => ans_eqb a (ARows cols (rows_of t (d_data w)))
-                       | None => is_error a
-                       end
-           | None => is_error a
-           end
-         | _ => match a with ARows _ _ | AHist _ _ => want_commit r v t a | _ => true end   (* refusing is fine; rows must be the right ones *)
-         end
-     if revdb_denotes r v then want_commit r v t a
-    else match (norm_base r (fst v), snd v) with
-         | (BBranch b, []) =>                         (* dirty branch: `db/branch` is the branch's working set *)
-           match branch_working r b with
-           | Some w => match assoc t (d_schema w) with
-                       | Some cols => ans_eqb a (ARows cols (rows_of t (d_data w)))
-                       | None => is_error a
-                       end
-           | None => is_error a
-           end
-         | _ => match a with ARows _ _ | AHist _ _ => want_commit r v t a | _ => true end   (* refusing is fine; rows must be the right ones *)
-         end
-a    if revdb_denotes r v then want_commit r v t a
-    else match (norm_base r (fst v), snd v) with
-         | (BBranch b, []) =>                         (* dirty branch: `db/branch` is the branch's working set *)
-           match branch_working r b with
-           | Some w => match assoc t (d_schema w) with
-                       | Some cols => ans_eqb a (ARows cols (rows_of t (d_data w)))
-                       | None => is_error a
-                       end
-           | None => is_error a
-           end
-         | _ => match a with ARows _ _ | AHist _ _ => want_commit r v t a | _ => true end   (* refusing is fine; rows must be the right ones *)
-         end
-
-    if revdb_denotes r v then want_commit r v t a
-    else match (norm_base r (fst v), snd v) with
-         | (BBranch b, []) =>                         (* dirty branch: `db/branch` is the branch's working set *)
-           match branch_working r b with
-           | Some w => match assoc t (d_schema w) with
-                       | Some cols => ans_eqb a (ARows cols (rows_of t (d_data w)))
-                       | None => is_error a
-                       end
-           | None => is_error a
-           end
-         | _ => match a with ARows _ _ | AHist _ _ => want_commit r v t a | _ => true end   (* refusing is fine; rows must be the right ones *)
-         end
-     if revdb_denotes r v then want_commit r v t a
-    else match (norm_base r (fst v), snd v) with
-         | (BBranch b, []) =>                         (* dirty branch: `db/branch` is the branch's working set *)
-           match branch_working r b with
-           | Some w => match assoc t (d_schema w) with
-                       | Some cols => ans_eqb a (ARows cols (rows_of t (d_data w)))
-                       | None => is_error a
-                       end
-           | None => is_error a
-           end
-         | _ => match a with ARows _ _ | AHist _ _ => want_commit r v t a | _ => true end   (* refusing is fine; rows must be the right ones *)
-         end
-     if revdb_denotes r v then want_commit r v t a
-    else match (norm_base r (fst v), snd v) with
-         | (BBranch b, []) =>                         (* dirty branch: `db/branch` is the branch's working set *)
-           match branch_working r b with
-           | Some w => match assoc t (d_schema w) with
-                       | Some cols => ans_eqb a (ARows cols (rows_of t (d_data w)))
-                       | None => is_error a
-                       end
-           | None => is_error a
-           end
-         | _ => match a with ARows _ _ | AHist _ _ => want_commit r v t a | _ => true end   (* refusing is fine; rows must be the right ones *)
-         end
-|    if revdb_denotes r v then want_commit r v t a
-    else match (norm_base r (fst v), snd v) with
-         | (BBranch b, []) =>                         (* dirty branch: `db/branch` is the branch's working set *)
-           match branch_working r b with
-           | Some w => match assoc t (d_schema w) with
-                       | Some cols => ans_eqb a (ARows cols (rows_of t (d_data w)))
-                       | None => is_error a
-                       end
-           | None => is_error a
-           end
-         | _ => match a with ARows _ _ | AHist _ _ => want_commit r v t a | _ => true end   (* refusing is fine; rows must be the right ones *)
-         end
-     if revdb_denotes r v then want_commit r v t a
-    else match (norm_base r (fst v), snd v) with
-         | (BBranch b, []) =>                         (* dirty branch: `db/branch` is the branch's working set *)
-           match branch_working r b with
-           | Some w => match assoc t (d_schema w) with
-                       | Some cols => ans_eqb a (ARows cols (rows_of t (d_data w)))
-                       | None => is_error a
-                       end
-           | None => is_error a
-           end
-         | _ => match a with ARows _ _ | AHist _ _ => want_commit r v t a | _ => true end   (* refusing is fine; rows must be the right ones *)
-         end
-Q    if revdb_denotes r v then want_commit r v t a
-    else match (norm_base r (fst v), snd v) with
-         | (BBranch b, []) =>                         (* dirty branch: `db/branch` is the branch's working set *)
-           match branch_working r b with
-           | Some w => match assoc t (d_schema w) with
-                       | Some cols => ans_eqb a (ARows cols (rows_of t (d_data w)))
-                       | None => is_error a
-                       end
-           | None => is_error a
-           end
-         | _ => match a with ARows _ _ | AHist _ _ => want_commit r v t a | _ => true end   (* refusing is fine; rows must be the right ones *)
-         end
-R    if revdb_denotes r v then want_commit r v t a
-    else match (norm_base r (fst v), snd v) with
-         | (BBranch b, []) =>                         (* dirty branch: `db/branch` is the branch's working set *)
-           match branch_working r b with
-           | Some w => match assoc t (d_schema w) with
-                       | Some cols => ans_eqb a (ARows cols (rows_of t (d_data w)))
-                       | None => is_error a
-                       end
-           | None => is_error a
-           end
-         | _ => match a with ARows _ _ | AHist _ _ => want_commit r v t a | _ => true end   (* refusing is fine; rows must be the right ones *)
-         end
-e    if revdb_denotes r v then want_commit r v t a
-    else match (norm_base r (fst v), snd v) with
-         | (BBranch b, []) =>                         (* dirty branch: `db/branch` is the branch's working set *)
-           match branch_working r b with
-           | Some w => match assoc t (d_schema w) with
-                       | Some cols => ans_eqb a (ARows cols (rows_of t (d_data w)))
-                       | None => is_error a
-                       end
-           | None => is_error a
-           end
-         | _ => match a with ARows _ _ | AHist _ _ => want_commit r v t a | _ => true end   (* refusing is fine; rows must be the right ones *)
-         end
-v    if revdb_denotes r v then want_commit r v t a
-    else match (norm_base r (fst v), snd v) with
-         | (BBranch b, []) =>                         (* dirty branch: `db/branch` is the branch's working set *)
-           match branch_working r b with
-           | Some w => match assoc t (d_schema w) with
-                       | Some cols => ans_eqb a (ARows cols (rows_of t (d_data w)))
-                       | None => is_error a
-                       end
-           | None => is_error a
-           end
-         | _ => match a with ARows _ _ | AHist _ _ => want_commit r v t a | _ => true end   (* refusing is fine; rows must be the right ones *)
-         end
-D    if revdb_denotes r v then want_commit r v t a
-    else match (norm_base r (fst v), snd v) with
-         | (BBranch b, []) =>                         (* dirty branch: `db/branch` is the branch's working set *)
-           match branch_working r b with
-           | Some w => match assoc t (d_schema w) with
-                       | Some cols => ans_eqb a (ARows cols (rows_of t (d_data w)))
-                       | None => is_error a
-                       end
-           | None => is_error a
-           end
-         | _ => match a with ARows _ _ | AHist _ _ => want_commit r v t a | _ => true end   (* refusing is fine; rows must be the right ones *)
-         end
-b    if revdb_denotes r v then want_commit r v t a
-    else match (norm_base r (fst v), snd v) with
-         | (BBranch b, []) =>                         (* dirty branch: `db/branch` is the branch's working set *)
-           match branch_working r b with
-           | Some w => match assoc t (d_schema w) with
-                       | Some cols => ans_eqb a (ARows cols (rows_of t (d_data w)))
-                       | None => is_error a
-                       end
-           | None => is_error a
-           end
-         | _ => match a with ARows _ _ | AHist _ _ => want_commit r v t a | _ => true end   (* refusing is fine; rows must be the right ones *)
-         end
-     if revdb_denotes r v then want_commit r v t a
-    else match (norm_base r (fst v), snd v) with
-         | (BBranch b, []) =>                         (* dirty branch: `db/branch` is the branch's working set *)
-           match branch_working r b with
-           | Some w => match assoc t (d_schema w) with
-                       | Some cols => ans_eqb a (ARows cols (rows_of t (d_data w)))
-                       | None => is_error a
-                       end
-           | None => is_error a
-           end
-         | _ => match a with ARows _ _ | AHist _ _ => want_commit r v t a | _ => true end   (* refusing is fine; rows must be the right ones *)
-         end
-v    if revdb_denotes r v then want_commit r v t a
-    else match (norm_base r (fst v), snd v) with
-         | (BBranch b, []) =>                         (* dirty branch: `db/branch` is the branch's working set *)
-           match branch_working r b with
-           | Some w => match assoc t (d_schema w) with
-                       | Some cols => ans_eqb a (ARows cols (rows_of t (d_data w)))
-                       | None => is_error a
-                       end
-           | None => is_error a
-           end
-         | _ => match a with ARows _ _ | AHist _ _ => want_commit r v t a | _ => true end   (* refusing is fine; rows must be the right ones *)
-         end
-     if revdb_denotes r v then want_commit r v t a
-    else match (norm_base r (fst v), snd v) with
-         | (BBranch b, []) =>                         (* dirty branch: `db/branch` is the branch's working set *)
-           match branch_working r b with
-           | Some w => match assoc t (d_schema w) with
-                       | Some cols => ans_eqb a (ARows cols (rows_of t (d_data w)))
-                       | None => is_error a
-                       end
-           | None => is_error a
-           end
-         | _ => match a with ARows _ _ | AHist _ _ => want_commit r v t a | _ => true end   (* refusing is fine; rows must be the right ones *)
-         end
-t    if revdb_denotes r v then want_commit r v t a
-    else match (norm_base r (fst v), snd v) with
-         | (BBranch b, []) =>                         (* dirty branch: `db/branch` is the branch's working set *)
-           match branch_working r b with
-           | Some w => match assoc t (d_schema w) with
-                       | Some cols => ans_eqb a (ARows cols (rows_of t (d_data w)))
-                       | None => is_error a
-                       end
-           | None => is_error a
-           end
-         | _ => match a with ARows _ _ | AHist _ _ => want_commit r v t a | _ => true end   (* refusing is fine; rows must be the right ones *)
-         end
-     if revdb_denotes r v then want_commit r v t a
-    else match (norm_base r (fst v), snd v) with
-         | (BBranch b, []) =>                         (* dirty branch: `db/branch` is the branch's working set *)
-           match branch_working r b with
-           | Some w => match assoc t (d_schema w) with
-                       | Some cols => ans_eqb a (ARows cols (rows_of t (d_data w)))
-                       | None => is_error a
-                       end
-           | None => is_error a
-           end
-         | _ => match a with ARows _ _ | AHist _ _ => want_commit r v t a | _ => true end   (* refusing is fine; rows must be the right ones *)
-         end
-|    if revdb_denotes r v then want_commit r v t a
-    else match (norm_base r (fst v), snd v) with
-         | (BBranch b, []) =>                         (* dirty branch: `db/branch` is the branch's working set *)
-           match branch_working r b with
-           | Some w => match assoc t (d_schema w) with
-                       | Some cols => ans_eqb a (ARows cols (rows_of t (d_data w)))
-                       | None => is_error a
-                       end
-           | None => is_error a
-           end
-         | _ => match a with ARows _ _ | AHist _ _ => want_commit r v t a | _ => true end   (* refusing is fine; rows must be the right ones *)
-         end
-     if revdb_denotes r v then want_commit r v t a
-    else match (norm_base r (fst v), snd v) with
-         | (BBranch b, []) =>                         (* dirty branch: `db/branch` is the branch's working set *)
-           match branch_working r b with
-           | Some w => match assoc t (d_schema w) with
-                       | Some cols => ans_eqb a (ARows cols (rows_of t (d_data w)))
-                       | None => is_error a
-                       end
-           | None => is_error a
-           end
-         | _ => match a with ARows _ _ | AHist _ _ => want_commit r v t a | _ => true end   (* refusing is fine; rows must be the right ones *)
-         end
-Q    if revdb_denotes r v then want_commit r v t a
-    else match (norm_base r (fst v), snd v) with
-         | (BBranch b, []) =>                         (* dirty branch: `db/branch` is the branch's working set *)
-           match branch_working r b with
-           | Some w => match assoc t (d_schema w) with
-                       | Some cols => ans_eqb a (ARows cols (rows_of t (d_data w)))
-                       | None => is_error a
-                       end
-           | None => is_error a
-           end
-         | _ => match a with ARows _ _ | AHist _ _ => want_commit r v t a | _ => true end   (* refusing is fine; rows must be the right ones *)
-         end
-U    if revdb_denotes r v then want_commit r v t a
-    else match (norm_base r (fst v), snd v) with
-         | (BBranch b, []) =>                         (* dirty branch: `db/branch` is the branch's working set *)
-           match branch_working r b with
-           | Some w => match assoc t (d_schema w) with
-                       | Some cols => ans_eqb a (ARows cols (rows_of t (d_data w)))
-                       | None => is_error a
-                       end
-           | None => is_error a
-           end
-         | _ => match a with ARows _ _ | AHist _ _ => want_commit r v t a | _ => true end   (* refusing is fine; rows must be the right ones *)
-         end
-s    if revdb_denotes r v then want_commit r v t a
-    else match (norm_base r (fst v), snd v) with
-         | (BBranch b, []) =>                         (* dirty branch: `db/branch` is the branch's working set *)
-           match branch_working r b with
-           | Some w => match assoc t (d_schema w) with
-                       | Some cols => ans_eqb a (ARows cols (rows_of t (d_data w)))
-                       | None => is_error a
-                       end
-           | None => is_error a
-           end
-         | _ => match a with ARows _ _ | AHist _ _ => want_commit r v t a | _ => true end   (* refusing is fine; rows must be the right ones *)
-         end
-e    if revdb_denotes r v then want_commit r v t a
-    else match (norm_base r (fst v), snd v) with
-         | (BBranch b, []) =>                         (* dirty branch: `db/branch` is the branch's working set *)
-           match branch_working r b with
-           | Some w => match assoc t (d_schema w) with
-                       | Some cols => ans_eqb a (ARows cols (rows_of t (d_data w)))
-                       | None => is_error a
-                       end
-           | None => is_error a
-           end
-         | _ => match a with ARows _ _ | AHist _ _ => want_commit r v t a | _ => true end   (* refusing is fine; rows must be the right ones *)
-         end
-R    if revdb_denotes r v then want_commit r v t a
-    else match (norm_base r (fst v), snd v) with
-         | (BBranch b, []) =>                         (* dirty branch: `db/branch` is the branch's working set *)
-           match branch_working r b with
-           | Some w => match assoc t (d_schema w) with
-                       | Some cols => ans_eqb a (ARows cols (rows_of t (d_data w)))
-                       | None => is_error a
-                       end
-           | None => is_error a
-           end
-         | _ => match a with ARows _ _ | AHist _ _ => want_commit r v t a | _ => true end   (* refusing is fine; rows must be the right ones *)
-         end
-e    if revdb_denotes r v then want_commit r v t a
-    else match (norm_base r (fst v), snd v) with
-         | (BBranch b, []) =>                         (* dirty branch: `db/branch` is the branch's working set *)
-           match branch_working r b with
-           | Some w => match assoc t (d_schema w) with
-                       | Some cols => ans_eqb a (ARows cols (rows_of t (d_data w)))
-                       | None => is_error a
-                       end
-           | None => is_error a
-           end
-         | _ => match a with ARows _ _ | AHist _ _ => want_commit r v t a | _ => true end   (* refusing is fine; rows must be the right ones *)
-         end
-v    if revdb_denotes r v then want_commit r v t a
-    else match (norm_base r (fst v), snd v) with
-         | (BBranch b, []) =>                         (* dirty branch: `db/branch` is the branch's working set *)
-           match branch_working r b with
-           | Some w => match assoc t (d_schema w) with
-                       | Some cols => ans_eqb a (ARows cols (rows_of t (d_data w)))
-                       | None => is_error a
-                       end
-           | None => is_error a
-           end
-         | _ => match a with ARows _ _ | AHist _ _ => want_commit r v t a | _ => true end   (* refusing is fine; rows must be the right ones *)
-         end
-D    if revdb_denotes r v then want_commit r v t a
-    else match (norm_base r (fst v), snd v) with
-         | (BBranch b, []) =>                         (* dirty branch: `db/branch` is the branch's working set *)
-           match branch_working r b with
-           | Some w => match assoc t (d_schema w) with
-                       | Some cols => ans_eqb a (ARows cols (rows_of t (d_data w)))
-                       | None => is_error a
-                       end
-           | None => is_error a
-           end
-         | _ => match a with ARows _ _ | AHist _ _ => want_commit r v t a | _ => true end   (* refusing is fine; rows must be the right ones *)
-         end
-b    if revdb_denotes r v then want_commit r v t a
-    else match (norm_base r (fst v), snd v) with
-         | (BBranch b, []) =>                         (* dirty branch: `db/branch` is the branch's working set *)
-           match branch_working r b with
-           | Some w => match assoc t (d_schema w) with
-                       | Some cols => ans_eqb a (ARows cols (rows_of t (d_data w)))
-                       | None => is_error a
-                       end
-           | None => is_error a
-           end
-         | _ => match a with ARows _ _ | AHist _ _ => want_commit r v t a | _ => true end   (* refusing is fine; rows must be the right ones *)
-         end
-     if revdb_denotes r v then want_commit r v t a
-    else match (norm_base r (fst v), snd v) with
-         | (BBranch b, []) =>                         (* dirty branch: `db/branch` is the branch's working set *)
-           match branch_working r b with
-           | Some w => match assoc t (d_schema w) with
-                       | Some cols => ans_eqb a (ARows cols (rows_of t (d_data w)))
-                       | None => is_error a
-                       end
-           | None => is_error a
-           end
-         | _ => match a with ARows _ _ | AHist _ _ => want_commit r v t a | _ => true end   (* refusing is fine; rows must be the right ones *)
-         end
-v    if revdb_denotes r v then want_commit r v t a
-    else match (norm_base r (fst v), snd v) with
-         | (BBranch b, []) =>                         (* dirty branch: `db/branch` is the branch's working set *)
-           match branch_working r b with
-           | Some w => match assoc t (d_schema w) with
-                       | Some cols => ans_eqb a (ARows cols (rows_of t (d_data w)))
-                       | None => is_error a
-                       end
-           | None => is_error a
-           end
-         | _ => match a with ARows _ _ | AHist _ _ => want_commit r v t a | _ => true end   (* refusing is fine; rows must be the right ones *)
-         end
-     if revdb_denotes r v then want_commit r v t a
-    else match (norm_base r (fst v), snd v) with
-         | (BBranch b, []) =>                         (* dirty branch: `db/branch` is the branch's working set *)
-           match branch_working r b with
-           | Some w => match assoc t (d_schema w) with
-                       | Some cols => ans_eqb a (ARows cols (rows_of t (d_data w)))
-                       | None => is_error a
-                       end
-           | None => is_error a
-           end
-         | _ => match a with ARows _ _ | AHist _ _ => want_commit r v t a | _ => true end   (* refusing is fine; rows must be the right ones *)
-         end
-t    if revdb_denotes r v then want_commit r v t a
-    else match (norm_base r (fst v), snd v) with
-         | (BBranch b, []) =>                         (* dirty branch: `db/branch` is the branch's working set *)
-           match branch_working r b with
-           | Some w => match assoc t (d_schema w) with
-                       | Some cols => ans_eqb a (ARows cols (rows_of t (d_data w)))
-                       | None => is_error a
-                       end
-           | None => is_error a
-           end
-         | _ => match a with ARows _ _ | AHist _ _ => want_commit r v t a | _ => true end   (* refusing is fine; rows must be the right ones *)
-         end
-     if revdb_denotes r v then want_commit r v t a
-    else match (norm_base r (fst v), snd v) with
-         | (BBranch b, []) =>                         (* dirty branch: `db/branch` is the branch's working set *)
-           match branch_working r b with
-           | Some w => match assoc t (d_schema w) with
-                       | Some cols => ans_eqb a (ARows cols (rows_of t (d_data w)))
-                       | None => is_error a
-                       end
-           | None => is_error a
-           end
-         | _ => match a with ARows _ _ | AHist _ _ => want_commit r v t a | _ => true end   (* refusing is fine; rows must be the right ones *)
-         end
-=    if revdb_denotes r v then want_commit r v t a
-    else match (norm_base r (fst v), snd v) with
-         | (BBranch b, []) =>                         (* dirty branch: `db/branch` is the branch's working set *)
-           match branch_working r b with
-           | Some w => match assoc t (d_schema w) with
-                       | Some cols => ans_eqb a (ARows cols (rows_of t (d_data w)))
-                       | None => is_error a
-                       end
-           | None => is_error a
-           end
-         | _ => match a with ARows _ _ | AHist _ _ => want_commit r v t a | _ => true end   (* refusing is fine; rows must be the right ones *)
-         end
->    if revdb_denotes r v then want_commit r v t a
-    else match (norm_base r (fst v), snd v) with
-         | (BBranch b, []) =>                         (* dirty branch: `db/branch` is the branch's working set *)
-           match branch_working r b with
-           | Some w => match assoc t (d_schema w) with
-                       | Some cols => ans_eqb a (ARows cols (rows_of t (d_data w)))
-                       | None => is_error a
-                       end
-           | None => is_error a
-           end
-         | _ => match a with ARows _ _ | AHist _ _ => want_commit r v t a | _ => true end   (* refusing is fine; rows must be the right ones *)
-         end
-
-    if revdb_denotes r v then want_commit r v t a
-    else match (norm_base r (fst v), snd v) with
-         | (BBranch b, []) =>                         (* dirty branch: `db/branch` is the branch's working set *)
-           match branch_working r b with
-           | Some w => match assoc t (d_schema w) with
-                       | Some cols => ans_eqb a (ARows cols (rows_of t (d_data w)))
-                       | None => is_error a
-                       end
-           | None => is_error a
-           end
-         | _ => match a with ARows _ _ | AHist _ _ => want_commit r v t a | _ => true end   (* refusing is fine; rows must be the right ones *)
-         end
-     if revdb_denotes r v then want_commit r v t a
-    else match (norm_base r (fst v), snd v) with
-         | (BBranch b, []) =>                         (* dirty branch: `db/branch` is the branch's working set *)
-           match branch_working r b with
-           | Some w => match assoc t (d_schema w) with
-                       | Some cols => ans_eqb a (ARows cols (rows_of t (d_data w)))
-                       | None => is_error a
-                       end
-           | None => is_error a
-           end
-         | _ => match a with ARows _ _ | AHist _ _ => want_commit r v t a | _ => true end   (* refusing is fine; rows must be the right ones *)
-         end
-     if revdb_denotes r v then want_commit r v t a
-    else match (norm_base r (fst v), snd v) with
-         | (BBranch b, []) =>                         (* dirty branch: `db/branch` is the branch's working set *)
-           match branch_working r b with
-           | Some w => match assoc t (d_schema w) with
-                       | Some cols => ans_eqb a (ARows cols (rows_of t (d_data w)))
-                       | None => is_error a
-                       end
-           | None => is_error a
-           end
-         | _ => match a with ARows _ _ | AHist _ _ => want_commit r v t a | _ => true end   (* refusing is fine; rows must be the right ones *)
-         end
-     if revdb_denotes r v then want_commit r v t a
-    else match (norm_base r (fst v), snd v) with
-         | (BBranch b, []) =>                         (* dirty branch: `db/branch` is the branch's working set *)
-           match branch_working r b with
-           | Some w => match assoc t (d_schema w) with
-                       | Some cols => ans_eqb a (ARows cols (rows_of t (d_data w)))
-                       | None => is_error a
-                       end
-           | None => is_error a
-           end
-         | _ => match a with ARows _ _ | AHist _ _ => want_commit r v t a | _ => true end   (* refusing is fine; rows must be the right ones *)
-         end
-     if revdb_denotes r v then want_commit r v t a
-    else match (norm_base r (fst v), snd v) with
-         | (BBranch b, []) =>                         (* dirty branch: `db/branch` is the branch's working set *)
-           match branch_working r b with
-           | Some w => match assoc t (d_schema w) with
-                       | Some cols => ans_eqb a (ARows cols (rows_of t (d_data w)))
-                       | None => is_error a
-                       end
-           | None => is_error a
-           end
-         | _ => match a with ARows _ _ | AHist _ _ => want_commit r v t a | _ => true end   (* refusing is fine; rows must be the right ones *)
-         end
-i    if revdb_denotes r v then want_commit r v t a
-    else match (norm_base r (fst v), snd v) with
-         | (BBranch b, []) =>                         (* dirty branch: `db/branch` is the branch's working set *)
-           match branch_working r b with
-           | Some w => match assoc t (d_schema w) with
-                       | Some cols => ans_eqb a (ARows cols (rows_of t (d_data w)))
-                       | None => is_error a
-                       end
-           | None => is_error a
-           end
-         | _ => match a with ARows _ _ | AHist _ _ => want_commit r v t a | _ => true end   (* refusing is fine; rows must be the right ones *)
-         end
-f    if revdb_denotes r v then want_commit r v t a
-    else match (norm_base r (fst v), snd v) with
-         | (BBranch b, []) =>                         (* dirty branch: `db/branch` is the branch's working set *)
-           match branch_working r b with
-           | Some w => match assoc t (d_schema w) with
-                       | Some cols => ans_eqb a (ARows cols (rows_of t (d_data w)))
-                       | None => is_error a
-                       end
-           | None => is_error a
-           end
-         | _ => match a with ARows _ _ | AHist _ _ => want_commit r v t a | _ => true end   (* refusing is fine; rows must be the right ones *)
-         end
-     if revdb_denotes r v then want_commit r v t a
-    else match (norm_base r (fst v), snd v) with
-         | (BBranch b, []) =>                         (* dirty branch: `db/branch` is the branch's working set *)
-           match branch_working r b with
-           | Some w => match assoc t (d_schema w) with
-                       | Some cols => ans_eqb a (ARows cols (rows_of t (d_data w)))
-                       | None => is_error a
-                       end
-           | None => is_error a
-           end
-         | _ => match a with ARows _ _ | AHist _ _ => want_commit r v t a | _ => true end   (* refusing is fine; rows must be the right ones *)
-         end
-r    if revdb_denotes r v then want_commit r v t a
-    else match (norm_base r (fst v), snd v) with
-         | (BBranch b, []) =>                         (* dirty branch: `db/branch` is the branch's working set *)
-           match branch_working r b with
-           | Some w => match assoc t (d_schema w) with
-                       | Some cols => ans_eqb a (ARows cols (rows_of t (d_data w)))
-                       | None => is_error a
-                       end
-           | None => is_error a
-           end
-         | _ => match a with ARows _ _ | AHist _ _ => want_commit r v t a | _ => true end   (* refusing is fine; rows must be the right ones *)
-         end
-e    if revdb_denotes r v then want_commit r v t a
-    else match (norm_base r (fst v), snd v) with
-         | (BBranch b, []) =>                         (* dirty branch: `db/branch` is the branch's working set *)
-           match branch_working r b with
-           | Some w => match assoc t (d_schema w) with
-                       | Some cols => ans_eqb a (ARows cols (rows_of t (d_data w)))
-                       | None => is_error a
-                       end
-           | None => is_error a
-           end
-         | _ => match a with ARows _ _ | AHist _ _ => want_commit r v t a | _ => true end   (* refusing is fine; rows must be the right ones *)
-         end
-v    if revdb_denotes r v then want_commit r v t a
-    else match (norm_base r (fst v), snd v) with
-         | (BBranch b, []) =>                         (* dirty branch: `db/branch` is the branch's working set *)
-           match branch_working r b with
-           | Some w => match assoc t (d_schema w) with
-                       | Some cols => ans_eqb a (ARows cols (rows_of t (d_data w)))
-                       | None => is_error a
-                       end
-           | None => is_error a
-           end
-         | _ => match a with ARows _ _ | AHist _ _ => want_commit r v t a | _ => true end   (* refusing is fine; rows must be the right ones *)
-         end
-d    if revdb_denotes r v then want_commit r v t a
-    else match (norm_base r (fst v), snd v) with
-         | (BBranch b, []) =>                         (* dirty branch: `db/branch` is the branch's working set *)
-           match branch_working r b with
-           | Some w => match assoc t (d_schema w) with
-                       | Some cols => ans_eqb a (ARows cols (rows_of t (d_data w)))
-                       | None => is_error a
-                       end
-           | None => is_error a
-           end
-         | _ => match a with ARows _ _ | AHist _ _ => want_commit r v t a | _ => true end   (* refusing is fine; rows must be the right ones *)
-         end
-b    if revdb_denotes r v then want_commit r v t a
-    else match (norm_base r (fst v), snd v) with
-         | (BBranch b, []) =>                         (* dirty branch: `db/branch` is the branch's working set *)
-           match branch_working r b with
-           | Some w => match assoc t (d_schema w) with
-                       | Some cols => ans_eqb a (ARows cols (rows_of t (d_data w)))
-                       | None => is_error a
-                       end
-           | None => is_error a
-           end
-         | _ => match a with ARows _ _ | AHist _ _ => want_commit r v t a | _ => true end   (* refusing is fine; rows must be the right ones *)
-         end
-_    if revdb_denotes r v then want_commit r v t a
-    else match (norm_base r (fst v), snd v) with
-         | (BBranch b, []) =>                         (* dirty branch: `db/branch` is the branch's working set *)
-           match branch_working r b with
-           | Some w => match assoc t (d_schema w) with
-                       | Some cols => ans_eqb a (ARows cols (rows_of t (d_data w)))
-                       | None => is_error a
-                       end
-           | None => is_error a
-           end
-         | _ => match a with ARows _ _ | AHist _ _ => want_commit r v t a | _ => true end   (* refusing is fine; rows must be the right ones *)
-         end
-d    if revdb_denotes r v then want_commit r v t a
-    else match (norm_base r (fst v), snd v) with
-         | (BBranch b, []) =>                         (* dirty branch: `db/branch` is the branch's working set *)
-           match branch_working r b with
-           | Some w => match assoc t (d_schema w) with
-                       | Some cols => ans_eqb a (ARows cols (rows_of t (d_data w)))
-                       | None => is_error a
-                       end
-           | None => is_error a
-           end
-         | _ => match a with ARows _ _ | AHist _ _ => want_commit r v t a | _ => true end   (* refusing is fine; rows must be the right ones *)
-         end
-e    if revdb_denotes r v then want_commit r v t a
-    else match (norm_base r (fst v), snd v) with
-         | (BBranch b, []) =>                         (* dirty branch: `db/branch` is the branch's working set *)
-           match branch_working r b with
-           | Some w => match assoc t (d_schema w) with
-                       | Some cols => ans_eqb a (ARows cols (rows_of t (d_data w)))
-                       | None => is_error a
-                       end
-           | None => is_error a
-           end
-         | _ => match a with ARows _ _ | AHist _ _ => want_commit r v t a | _ => true end   (* refusing is fine; rows must be the right ones *)
-         end
-n    if revdb_denotes r v then want_commit r v t a
-    else match (norm_base r (fst v), snd v) with
-         | (BBranch b, []) =>                         (* dirty branch: `db/branch` is the branch's working set *)
-           match branch_working r b with
-           | Some w => match assoc t (d_schema w) with
-                       | Some cols => ans_eqb a (ARows cols (rows_of t (d_data w)))
-                       | None => is_error a
-                       end
-           | None => is_error a
-           end
-         | _ => match a with ARows _ _ | AHist _ _ => want_commit r v t a | _ => true end   (* refusing is fine; rows must be the right ones *)
-         end
-o    if revdb_denotes r v then want_commit r v t a
-    else match (norm_base r (fst v), snd v) with
-         | (BBranch b, []) =>                         (* dirty branch: `db/branch` is the branch's working set *)
-           match branch_working r b with
-           | Some w => match assoc t (d_schema w) with
-                       | Some cols => ans_eqb a (ARows cols (rows_of t (d_data w)))
-                       | None => is_error a
-                       end
-           | None => is_error a
-           end
-         | _ => match a with ARows _ _ | AHist _ _ => want_commit r v t a | _ => true end   (* refusing is fine; rows must be the right ones *)
-         end
-t    if revdb_denotes r v then want_commit r v t a
-    else match (norm_base r (fst v), snd v) with
-         | (BBranch b, []) =>                         (* dirty branch: `db/branch` is the branch's working set *)
-           match branch_working r b with
-           | Some w => match assoc t (d_schema w) with
-                       | Some cols => ans_eqb a (ARows cols (rows_of t (d_data w)))
-                       | None => is_error a
-                       end
-           | None => is_error a
-           end
-         | _ => match a with ARows _ _ | AHist _ _ => want_commit r v t a | _ => true end   (* refusing is fine; rows must be the right ones *)
-         end
-e    if revdb_denotes r v then want_commit r v t a
-    else match (norm_base r (fst v), snd v) with
-         | (BBranch b, []) =>                         (* dirty branch: `db/branch` is the branch's working set *)
-           match branch_working r b with
-           | Some w => match assoc t (d_schema w) with
-                       | Some cols => ans_eqb a (ARows cols (rows_of t (d_data w)))
-                       | None => is_error a
-                       end
-           | None => is_error a
-           end
-         | _ => match a with ARows _ _ | AHist _ _ => want_commit r v t a | _ => true end   (* refusing is fine; rows must be the right ones *)
-         end
-s    if revdb_denotes r v then want_commit r v t a
-    else match (norm_base r (fst v), snd v) with
-         | (BBranch b, []) =>                         (* dirty branch: `db/branch` is the branch's working set *)
-           match branch_working r b with
-           | Some w => match assoc t (d_schema w) with
-                       | Some cols => ans_eqb a (ARows cols (rows_of t (d_data w)))
-                       | None => is_error a
-                       end
-           | None => is_error a
-           end
-         | _ => match a with ARows _ _ | AHist _ _ => want_commit r v t a | _ => true end   (* refusing is fine; rows must be the right ones *)
-         end
-     if revdb_denotes r v then want_commit r v t a
-    else match (norm_base r (fst v), snd v) with
-         | (BBranch b, []) =>                         (* dirty branch: `db/branch` is the branch's working set *)
-           match branch_working r b with
-           | Some w => match assoc t (d_schema w) with
-                       | Some cols => ans_eqb a (ARows cols (rows_of t (d_data w)))
-                       | None => is_error a
-                       end
-           | None => is_error a
-           end
-         | _ => match a with ARows _ _ | AHist _ _ => want_commit r v t a | _ => true end   (* refusing is fine; rows must be the right ones *)
-         end
-r    if revdb_denotes r v then want_commit r v t a
-    else match (norm_base r (fst v), snd v) with
-         | (BBranch b, []) =>                         (* dirty branch: `db/branch` is the branch's working set *)
-           match branch_working r b with
-           | Some w => match assoc t (d_schema w) with
-                       | Some cols => ans_eqb a (ARows cols (rows_of t (d_data w)))
-                       | None => is_error a
-                       end
-           | None => is_error a
-           end
-         | _ => match a with ARows _ _ | AHist _ _ => want_commit r v t a | _ => true end   (* refusing is fine; rows must be the right ones *)
-         end
-     if revdb_denotes r v then want_commit r v t a
-    else match (norm_base r (fst v), snd v) with
-         | (BBranch b, []) =>                         (* dirty branch: `db/branch` is the branch's working set *)
-           match branch_working r b with
-           | Some w => match assoc t (d_schema w) with
-                       | Some cols => ans_eqb a (ARows cols (rows_of t (d_data w)))
-                       | None => is_error a
-                       end
-           | None => is_error a
-           end
-         | _ => match a with ARows _ _ | AHist _ _ => want_commit r v t a | _ => true end   (* refusing is fine; rows must be the right ones *)
-         end
-v    if revdb_denotes r v then want_commit r v t a
-    else match (norm_base r (fst v), snd v) with
-         | (BBranch b, []) =>                         (* dirty branch: `db/branch` is the branch's working set *)
-           match branch_working r b with
-           | Some w => match assoc t (d_schema w) with
-                       | Some cols => ans_eqb a (ARows cols (rows_of t (d_data w)))
-                       | None => is_error a
-                       end
-           | None => is_error a
-           end
-         | _ => match a with ARows _ _ | AHist _ _ => want_commit r v t a | _ => true end   (* refusing is fine; rows must be the right ones *)
-         end
-     if revdb_denotes r v then want_commit r v t a
-    else match (norm_base r (fst v), snd v) with
-         | (BBranch b, []) =>                         (* dirty branch: `db/branch` is the branch's working set *)
-           match branch_working r b with
-           | Some w => match assoc t (d_schema w) with
-                       | Some cols => ans_eqb a (ARows cols (rows_of t (d_data w)))
-                       | None => is_error a
-                       end
-           | None => is_error a
-           end
-         | _ => match a with ARows _ _ | AHist _ _ => want_commit r v t a | _ => true end   (* refusing is fine; rows must be the right ones *)
-         end
-t    if revdb_denotes r v then want_commit r v t a
-    else match (norm_base r (fst v), snd v) with
-         | (BBranch b, []) =>                         (* dirty branch: `db/branch` is the branch's working set *)
-           match branch_working r b with
-           | Some w => match assoc t (d_schema w) with
-                       | Some cols => ans_eqb a (ARows cols (rows_of t (d_data w)))
-                       | None => is_error a
-                       end
-           | None => is_error a
-           end
-         | _ => match a with ARows _ _ | AHist _ _ => want_commit r v t a | _ => true end   (* refusing is fine; rows must be the right ones *)
-         end
-h    if revdb_denotes r v then want_commit r v t a
-    else match (norm_base r (fst v), snd v) with
-         | (BBranch b, []) =>                         (* dirty branch: `db/branch` is the branch's working set *)
-           match branch_working r b with
-           | Some w => match assoc t (d_schema w) with
-                       | Some cols => ans_eqb a (ARows cols (rows_of t (d_data w)))
-                       | None => is_error a
-                       end
-           | None => is_error a
-           end
-         | _ => match a with ARows _ _ | AHist _ _ => want_commit r v t a | _ => true end   (* refusing is fine; rows must be the right ones *)
-         end
-e    if revdb_denotes r v then want_commit r v t a
-    else match (norm_base r (fst v), snd v) with
-         | (BBranch b, []) =>                         (* dirty branch: `db/branch` is the branch's working set *)
-           match branch_working r b with
-           | Some w => match assoc t (d_schema w) with
-                       | Some cols => ans_eqb a (ARows cols (rows_of t (d_data w)))
-                       | None => is_error a
-                       end
-           | None => is_error a
-           end
-         | _ => match a with ARows _ _ | AHist _ _ => want_commit r v t a | _ => true end   (* refusing is fine; rows must be the right ones *)
-         end
-n    if revdb_denotes r v then want_commit r v t a
-    else match (norm_base r (fst v), snd v) with
-         | (BBranch b, []) =>                         (* dirty branch: `db/branch` is the branch's working set *)
-           match branch_working r b with
-           | Some w => match assoc t (d_schema w) with
-                       | Some cols => ans_eqb a (ARows cols (rows_of t (d_data w)))
-                       | None => is_error a
-                       end
-           | None => is_error a
-           end
-         | _ => match a with ARows _ _ | AHist _ _ => want_commit r v t a | _ => true end   (* refusing is fine; rows must be the right ones *)
-         end
-     if revdb_denotes r v then want_commit r v t a
-    else match (norm_base r (fst v), snd v) with
-         | (BBranch b, []) =>                         (* dirty branch: `db/branch` is the branch's working set *)
-           match branch_working r b with
-           | Some w => match assoc t (d_schema w) with
-                       | Some cols => ans_eqb a (ARows cols (rows_of t (d_data w)))
-                       | None => is_error a
-                       end
-           | None => is_error a
-           end
-         | _ => match a with ARows _ _ | AHist _ _ => want_commit r v t a | _ => true end   (* refusing is fine; rows must be the right ones *)
-         end
-w    if revdb_denotes r v then want_commit r v t a
-    else match (norm_base r (fst v), snd v) with
-         | (BBranch b, []) =>                         (* dirty branch: `db/branch` is the branch's working set *)
-           match branch_working r b with
-           | Some w => match assoc t (d_schema w) with
-                       | Some cols => ans_eqb a (ARows cols (rows_of t (d_data w)))
-                       | None => is_error a
-                       end
-           | None => is_error a
-           end
-         | _ => match a with ARows _ _ | AHist _ _ => want_commit r v t a | _ => true end   (* refusing is fine; rows must be the right ones *)
-         end
-a    if revdb_denotes r v then want_commit r v t a
-    else match (norm_base r (fst v), snd v) with
-         | (BBranch b, []) =>                         (* dirty branch: `db/branch` is the branch's working set *)
-           match branch_working r b with
-           | Some w => match assoc t (d_schema w) with
-                       | Some cols => ans_eqb a (ARows cols (rows_of t (d_data w)))
-                       | None => is_error a
-                       end
-           | None => is_error a
-           end
-         | _ => match a with ARows _ _ | AHist _ _ => want_commit r v t a | _ => true end   (* refusing is fine; rows must be the right ones *)
-         end
-n    if revdb_denotes r v then want_commit r v t a
-    else match (norm_base r (fst v), snd v) with
-         | (BBranch b, []) =>                         (* dirty branch: `db/branch` is the branch's working set *)
-           match branch_working r b with
-           | Some w => match assoc t (d_schema w) with
-                       | Some cols => ans_eqb a (ARows cols (rows_of t (d_data w)))
-                       | None => is_error a
-                       end
-           | None => is_error a
-           end
-         | _ => match a with ARows _ _ | AHist _ _ => want_commit r v t a | _ => true end   (* refusing is fine; rows must be the right ones *)
-         end
-t    if revdb_denotes r v then want_commit r v t a
-    else match (norm_base r (fst v), snd v) with
-         | (BBranch b, []) =>                         (* dirty branch: `db/branch` is the branch's working set *)
-           match branch_working r b with
-           | Some w => match assoc t (d_schema w) with
-                       | Some cols => ans_eqb a (ARows cols (rows_of t (d_data w)))
-                       | None => is_error a
-                       end
-           | None => is_error a
-           end
-         | _ => match a with ARows _ _ | AHist _ _ => want_commit r v t a | _ => true end   (* refusing is fine; rows must be the right ones *)
-         end
-_    if revdb_denotes r v then want_commit r v t a
-    else match (norm_base r (fst v), snd v) with
-         | (BBranch b, []) =>                         (* dirty branch: `db/branch` is the branch's working set *)
-           match branch_working r b with
-           | Some w => match assoc t (d_schema w) with
-                       | Some cols => ans_eqb a (ARows cols (rows_of t (d_data w)))
-                       | None => is_error a
-                       end
-           | None => is_error a
-           end
-         | _ => match a with ARows _ _ | AHist _ _ => want_commit r v t a | _ => true end   (* refusing is fine; rows must be the right ones *)
-         end
-c    if revdb_denotes r v then want_commit r v t a
-    else match (norm_base r (fst v), snd v) with
-         | (BBranch b, []) =>                         (* dirty branch: `db/branch` is the branch's working set *)
-           match branch_working r b with
-           | Some w => match assoc t (d_schema w) with
-                       | Some cols => ans_eqb a (ARows cols (rows_of t (d_data w)))
-                       | None => is_error a
-                       end
-           | None => is_error a
-           end
-         | _ => match a with ARows _ _ | AHist _ _ => want_commit r v t a | _ => true end   (* refusing is fine; rows must be the right ones *)
-         end
-o    if revdb_denotes r v then want_commit r v t a
-    else match (norm_base r (fst v), snd v) with
-         | (BBranch b, []) =>                         (* dirty branch: `db/branch` is the branch's working set *)
-           match branch_working r b with
-           | Some w => match assoc t (d_schema w) with
-                       | Some cols => ans_eqb a (ARows cols (rows_of t (d_data w)))
-                       | None => is_error a
-                       end
-           | None => is_error a
-           end
-         | _ => match a with ARows _ _ | AHist _ _ => want_commit r v t a | _ => true end   (* refusing is fine; rows must be the right ones *)
-         end
-m    if revdb_denotes r v then want_commit r v t a
-    else match (norm_base r (fst v), snd v) with
-         | (BBranch b, []) =>                         (* dirty branch: `db/branch` is the branch's working set *)
-           match branch_working r b with
-           | Some w => match assoc t (d_schema w) with
-                       | Some cols => ans_eqb a (ARows cols (rows_of t (d_data w)))
-                       | None => is_error a
-                       end
-           | None => is_error a
-           end
-         | _ => match a with ARows _ _ | AHist _ _ => want_commit r v t a | _ => true end   (* refusing is fine; rows must be the right ones *)
-         end
-m    if revdb_denotes r v then want_commit r v t a
-    else match (norm_base r (fst v), snd v) with
-         | (BBranch b, []) =>                         (* dirty branch: `db/branch` is the branch's working set *)
-           match branch_working r b with
-           | Some w => match assoc t (d_schema w) with
-                       | Some cols => ans_eqb a (ARows cols (rows_of t (d_data w)))
-                       | None => is_error a
-                       end
-           | None => is_error a
-           end
-         | _ => match a with ARows _ _ | AHist _ _ => want_commit r v t a | _ => true end   (* refusing is fine; rows must be the right ones *)
-         end
-i    if revdb_denotes r v then want_commit r v t a
-    else match (norm_base r (fst v), snd v) with
-         | (BBranch b, []) =>                         (* dirty branch: `db/branch` is the branch's working set *)
-           match branch_working r b with
-           | Some w => match assoc t (d_schema w) with
-                       | Some cols => ans_eqb a (ARows cols (rows_of t (d_data w)))
-                       | None => is_error a
-                       end
-           | None => is_error a
-           end
-         | _ => match a with ARows _ _ | AHist _ _ => want_commit r v t a | _ => true end   (* refusing is fine; rows must be the right ones *)
-         end
-t    if revdb_denotes r v then want_commit r v t a
-    else match (norm_base r (fst v), snd v) with
-         | (BBranch b, []) =>                         (* dirty branch: `db/branch` is the branch's working set *)
-           match branch_working r b with
-           | Some w => match assoc t (d_schema w) with
-                       | Some cols => ans_eqb a (ARows cols (rows_of t (d_data w)))
-                       | None => is_error a
-                       end
-           | None => is_error a
-           end
-         | _ => match a with ARows _ _ | AHist _ _ => want_commit r v t a | _ => true end   (* refusing is fine; rows must be the right ones *)
-         end
-     if revdb_denotes r v then want_commit r v t a
-    else match (norm_base r (fst v), snd v) with
-         | (BBranch b, []) =>                         (* dirty branch: `db/branch` is the branch's working set *)
-           match branch_working r b with
-           | Some w => match assoc t (d_schema w) with
-                       | Some cols => ans_eqb a (ARows cols (rows_of t (d_data w)))
-                       | None => is_error a
-                       end
-           | None => is_error a
-           end
-         | _ => match a with ARows _ _ | AHist _ _ => want_commit r v t a | _ => true end   (* refusing is fine; rows must be the right ones *)
-         end
-r    if revdb_denotes r v then want_commit r v t a
-    else match (norm_base r (fst v), snd v) with
-         | (BBranch b, []) =>                         (* dirty branch: `db/branch` is the branch's working set *)
-           match branch_working r b with
-           | Some w => match assoc t (d_schema w) with
-                       | Some cols => ans_eqb a (ARows cols (rows_of t (d_data w)))
-                       | None => is_error a
-                       end
-           | None => is_error a
-           end
-         | _ => match a with ARows _ _ | AHist _ _ => want_commit r v t a | _ => true end   (* refusing is fine; rows must be the right ones *)
-         end
-     if revdb_denotes r v then want_commit r v t a
-    else match (norm_base r (fst v), snd v) with
-         | (BBranch b, []) =>                         (* dirty branch: `db/branch` is the branch's working set *)
-           match branch_working r b with
-           | Some w => match assoc t (d_schema w) with
-                       | Some cols => ans_eqb a (ARows cols (rows_of t (d_data w)))
-                       | None => is_error a
-                       end
-           | None => is_error a
-           end
-         | _ => match a with ARows _ _ | AHist _ _ => want_commit r v t a | _ => true end   (* refusing is fine; rows must be the right ones *)
-         end
-v    if revdb_denotes r v then want_commit r v t a
-    else match (norm_base r (fst v), snd v) with
-         | (BBranch b, []) =>                         (* dirty branch: `db/branch` is the branch's working set *)
-           match branch_working r b with
-           | Some w => match assoc t (d_schema w) with
-                       | Some cols => ans_eqb a (ARows cols (rows_of t (d_data w)))
-                       | None => is_error a
-                       end
-           | None => is_error a
-           end
-         | _ => match a with ARows _ _ | AHist _ _ => want_commit r v t a | _ => true end   (* refusing is fine; rows must be the right ones *)
-         end
-     if revdb_denotes r v then want_commit r v t a
-    else match (norm_base r (fst v), snd v) with
-         | (BBranch b, []) =>                         (* dirty branch: `db/branch` is the branch's working set *)
-           match branch_working r b with
-           | Some w => match assoc t (d_schema w) with
-                       | Some cols => ans_eqb a (ARows cols (rows_of t (d_data w)))
-                       | None => is_error a
-                       end
-           | None => is_error a
-           end
-         | _ => match a with ARows _ _ | AHist _ _ => want_commit r v t a | _ => true end   (* refusing is fine; rows must be the right ones *)
-         end
-t    if revdb_denotes r v then want_commit r v t a
-    else match (norm_base r (fst v), snd v) with
-         | (BBranch b, []) =>                         (* dirty branch: `db/branch` is the branch's working set *)
-           match branch_working r b with
-           | Some w => match assoc t (d_schema w) with
-                       | Some cols => ans_eqb a (ARows cols (rows_of t (d_data w)))
-                       | None => is_error a
-                       end
-           | None => is_error a
-           end
-         | _ => match a with ARows _ _ | AHist _ _ => want_commit r v t a | _ => true end   (* refusing is fine; rows must be the right ones *)
-         end
-     if revdb_denotes r v then want_commit r v t a
-    else match (norm_base r (fst v), snd v) with
-         | (BBranch b, []) =>                         (* dirty branch: `db/branch` is the branch's working set *)
-           match branch_working r b with
-           | Some w => match assoc t (d_schema w) with
-                       | Some cols => ans_eqb a (ARows cols (rows_of t (d_data w)))
-                       | None => is_error a
-                       end
-           | None => is_error a
-           end
-         | _ => match a with ARows _ _ | AHist _ _ => want_commit r v t a | _ => true end   (* refusing is fine; rows must be the right ones *)
-         end
-a    if revdb_denotes r v then want_commit r v t a
-    else match (norm_base r (fst v), snd v) with
-         | (BBranch b, []) =>                         (* dirty branch: `db/branch` is the branch's working set *)
-           match branch_working r b with
-           | Some w => match assoc t (d_schema w) with
-                       | Some cols => ans_eqb a (ARows cols (rows_of t (d_data w)))
-                       | None => is_error a
-                       end
-           | None => is_error a
-           end
-         | _ => match a with ARows _ _ | AHist _ _ => want_commit r v t a | _ => true end   (* refusing is fine; rows must be the right ones *)
-         end
-
-    if revdb_denotes r v then want_commit r v t a
-    else match (norm_base r (fst v), snd v) with
-         | (BBranch b, []) =>                         (* dirty branch: `db/branch` is the branch's working set *)
-           match branch_working r b with
-           | Some w => match assoc t (d_schema w) with
-                       | Some cols => ans_eqb a (ARows cols (rows_of t (d_data w)))
-                       | None => is_error a
-                       end
-           | None => is_error a
-           end
-         | _ => match a with ARows _ _ | AHist _ _ => want_commit r v t a | _ => true end   (* refusing is fine; rows must be the right ones *)
-         end
-     if revdb_denotes r v then want_commit r v t a
-    else match (norm_base r (fst v), snd v) with
-         | (BBranch b, []) =>                         (* dirty branch: `db/branch` is the branch's working set *)
-           match branch_working r b with
-           | Some w => match assoc t (d_schema w) with
-                       | Some cols => ans_eqb a (ARows cols (rows_of t (d_data w)))
-                       | None => is_error a
-                       end
-           | None => is_error a
-           end
-         | _ => match a with ARows _ _ | AHist _ _ => want_commit r v t a | _ => true end   (* refusing is fine; rows must be the right ones *)
-         end
-     if revdb_denotes r v then want_commit r v t a
-    else match (norm_base r (fst v), snd v) with
-         | (BBranch b, []) =>                         (* dirty branch: `db/branch` is the branch's working set *)
-           match branch_working r b with
-           | Some w => match assoc t (d_schema w) with
-                       | Some cols => ans_eqb a (ARows cols (rows_of t (d_data w)))
-                       | None => is_error a
-                       end
-           | None => is_error a
-           end
-         | _ => match a with ARows _ _ | AHist _ _ => want_commit r v t a | _ => true end   (* refusing is fine; rows must be the right ones *)
-         end
-     if revdb_denotes r v then want_commit r v t a
-    else match (norm_base r (fst v), snd v) with
-         | (BBranch b, []) =>                         (* dirty branch: `db/branch` is the branch's working set *)
-           match branch_working r b with
-           | Some w => match assoc t (d_schema w) with
-                       | Some cols => ans_eqb a (ARows cols (rows_of t (d_data w)))
-                       | None => is_error a
-                       end
-           | None => is_error a
-           end
-         | _ => match a with ARows _ _ | AHist _ _ => want_commit r v t a | _ => true end   (* refusing is fine; rows must be the right ones *)
-         end
-     if revdb_denotes r v then want_commit r v t a
-    else match (norm_base r (fst v), snd v) with
-         | (BBranch b, []) =>                         (* dirty branch: `db/branch` is the branch's working set *)
-           match branch_working r b with
-           | Some w => match assoc t (d_schema w) with
-                       | Some cols => ans_eqb a (ARows cols (rows_of t (d_data w)))
-                       | None => is_error a
-                       end
-           | None => is_error a
-           end
-         | _ => match a with ARows _ _ | AHist _ _ => want_commit r v t a | _ => true end   (* refusing is fine; rows must be the right ones *)
-         end
-e    if revdb_denotes r v then want_commit r v t a
-    else match (norm_base r (fst v), snd v) with
-         | (BBranch b, []) =>                         (* dirty branch: `db/branch` is the branch's working set *)
-           match branch_working r b with
-           | Some w => match assoc t (d_schema w) with
-                       | Some cols => ans_eqb a (ARows cols (rows_of t (d_data w)))
-                       | None => is_error a
-                       end
-           | None => is_error a
-           end
-         | _ => match a with ARows _ _ | AHist _ _ => want_commit r v t a | _ => true end   (* refusing is fine; rows must be the right ones *)
-         end
-l    if revdb_denotes r v then want_commit r v t a
-    else match (norm_base r (fst v), snd v) with
-         | (BBranch b, []) =>                         (* dirty branch: `db/branch` is the branch's working set *)
-           match branch_working r b with
-           | Some w => match assoc t (d_schema w) with
-                       | Some cols => ans_eqb a (ARows cols (rows_of t (d_data w)))
-                       | None => is_error a
-                       end
-           | None => is_error a
-           end
-         | _ => match a with ARows _ _ | AHist _ _ => want_commit r v t a | _ => true end   (* refusing is fine; rows must be the right ones *)
-         end
-s    if revdb_denotes r v then want_commit r v t a
-    else match (norm_base r (fst v), snd v) with
-         | (BBranch b, []) =>                         (* dirty branch: `db/branch` is the branch's working set *)
-           match branch_working r b with
-           | Some w => match assoc t (d_schema w) with
-                       | Some cols => ans_eqb a (ARows cols (rows_of t (d_data w)))
-                       | None => is_error a
-                       end
-           | None => is_error a
-           end
-         | _ => match a with ARows _ _ | AHist _ _ => want_commit r v t a | _ => true end   (* refusing is fine; rows must be the right ones *)
-         end
-e    if revdb_denotes r v then want_commit r v t a
-    else match (norm_base r (fst v), snd v) with
-         | (BBranch b, []) =>                         (* dirty branch: `db/branch` is the branch's working set *)
-           match branch_working r b with
-           | Some w => match assoc t (d_schema w) with
-                       | Some cols => ans_eqb a (ARows cols (rows_of t (d_data w)))
-                       | None => is_error a
-                       end
-           | None => is_error a
-           end
-         | _ => match a with ARows _ _ | AHist _ _ => want_commit r v t a | _ => true end   (* refusing is fine; rows must be the right ones *)
-         end
-     if revdb_denotes r v then want_commit r v t a
-    else match (norm_base r (fst v), snd v) with
-         | (BBranch b, []) =>                         (* dirty branch: `db/branch` is the branch's working set *)
-           match branch_working r b with
-           | Some w => match assoc t (d_schema w) with
-                       | Some cols => ans_eqb a (ARows cols (rows_of t (d_data w)))
-                       | None => is_error a
-                       end
-           | None => is_error a
-           end
-         | _ => match a with ARows _ _ | AHist _ _ => want_commit r v t a | _ => true end   (* refusing is fine; rows must be the right ones *)
-         end
-m    if revdb_denotes r v then want_commit r v t a
-    else match (norm_base r (fst v), snd v) with
-         | (BBranch b, []) =>                         (* dirty branch: `db/branch` is the branch's working set *)
-           match branch_working r b with
-           | Some w => match assoc t (d_schema w) with
-                       | Some cols => ans_eqb a (ARows cols (rows_of t (d_data w)))
-                       | None => is_error a
-                       end
-           | None => is_error a
-           end
-         | _ => match a with ARows _ _ | AHist _ _ => want_commit r v t a | _ => true end   (* refusing is fine; rows must be the right ones *)
-         end
-a    if revdb_denotes r v then want_commit r v t a
-    else match (norm_base r (fst v), snd v) with
-         | (BBranch b, []) =>                         (* dirty branch: `db/branch` is the branch's working set *)
-           match branch_working r b with
-           | Some w => match assoc t (d_schema w) with
-                       | Some cols => ans_eqb a (ARows cols (rows_of t (d_data w)))
-                       | None => is_error a
-                       end
-           | None => is_error a
-           end
-         | _ => match a with ARows _ _ | AHist _ _ => want_commit r v t a | _ => true end   (* refusing is fine; rows must be the right ones *)
-         end
-t    if revdb_denotes r v then want_commit r v t a
-    else match (norm_base r (fst v), snd v) with
-         | (BBranch b, []) =>                         (* dirty branch: `db/branch` is the branch's working set *)
-           match branch_working r b with
-           | Some w => match assoc t (d_schema w) with
-                       | Some cols => ans_eqb a (ARows cols (rows_of t (d_data w)))
-                       | None => is_error a
-                       end
-           | None => is_error a
-           end
-         | _ => match a with ARows _ _ | AHist _ _ => want_commit r v t a | _ => true end   (* refusing is fine; rows must be the right ones *)
-         end
-c    if revdb_denotes r v then want_commit r v t a
-    else match (norm_base r (fst v), snd v) with
-         | (BBranch b, []) =>                         (* dirty branch: `db/branch` is the branch's working set *)
-           match branch_working r b with
-           | Some w => match assoc t (d_schema w) with
-                       | Some cols => ans_eqb a (ARows cols (rows_of t (d_data w)))
-                       | None => is_error a
-                       end
-           | None => is_error a
-           end
-         | _ => match a with ARows _ _ | AHist _ _ => want_commit r v t a | _ => true end   (* refusing is fine; rows must be the right ones *)
-         end
-h    if revdb_denotes r v then want_commit r v t a
-    else match (norm_base r (fst v), snd v) with
-         | (BBranch b, []) =>                         (* dirty branch: `db/branch` is the branch's working set *)
-           match branch_working r b with
-           | Some w => match assoc t (d_schema w) with
-                       | Some cols => ans_eqb a (ARows cols (rows_of t (d_data w)))
-                       | None => is_error a
-                       end
-           | None => is_error a
-           end
-         | _ => match a with ARows _ _ | AHist _ _ => want_commit r v t a | _ => true end   (* refusing is fine; rows must be the right ones *)
-         end
-     if revdb_denotes r v then want_commit r v t a
-    else match (norm_base r (fst v), snd v) with
-         | (BBranch b, []) =>                         (* dirty branch: `db/branch` is the branch's working set *)
-           match branch_working r b with
-           | Some w => match assoc t (d_schema w) with
-                       | Some cols => ans_eqb a (ARows cols (rows_of t (d_data w)))
-                       | None => is_error a
-                       end
-           | None => is_error a
-           end
-         | _ => match a with ARows _ _ | AHist _ _ => want_commit r v t a | _ => true end   (* refusing is fine; rows must be the right ones *)
-         end
-v    if revdb_denotes r v then want_commit r v t a
-    else match (norm_base r (fst v), snd v) with
-         | (BBranch b, []) =>                         (* dirty branch: `db/branch` is the branch's working set *)
-           match branch_working r b with
-           | Some w => match assoc t (d_schema w) with
-                       | Some cols => ans_eqb a (ARows cols (rows_of t (d_data w)))
-                       | None => is_error a
-                       end
-           | None => is_error a
-           end
-         | _ => match a with ARows _ _ | AHist _ _ => want_commit r v t a | _ => true end   (* refusing is fine; rows must be the right ones *)
-         end
-     if revdb_denotes r v then want_commit r v t a
-    else match (norm_base r (fst v), snd v) with
-         | (BBranch b, []) =>                         (* dirty branch: `db/branch` is the branch's working set *)
-           match branch_working r b with
-           | Some w => match assoc t (d_schema w) with
-                       | Some cols => ans_eqb a (ARows cols (rows_of t (d_data w)))
-                       | None => is_error a
-                       end
-           | None => is_error a
-           end
-         | _ => match a with ARows _ _ | AHist _ _ => want_commit r v t a | _ => true end   (* refusing is fine; rows must be the right ones *)
-         end
-w    if revdb_denotes r v then want_commit r v t a
-    else match (norm_base r (fst v), snd v) with
-         | (BBranch b, []) =>                         (* dirty branch: `db/branch` is the branch's working set *)
-           match branch_working r b with
-           | Some w => match assoc t (d_schema w) with
-                       | Some cols => ans_eqb a (ARows cols (rows_of t (d_data w)))
-                       | None => is_error a
-                       end
-           | None => is_error a
-           end
-         | _ => match a with ARows _ _ | AHist _ _ => want_commit r v t a | _ => true end   (* refusing is fine; rows must be the right ones *)
-         end
-i    if revdb_denotes r v then want_commit r v t a
-    else match (norm_base r (fst v), snd v) with
-         | (BBranch b, []) =>                         (* dirty branch: `db/branch` is the branch's working set *)
-           match branch_working r b with
-           | Some w => match assoc t (d_schema w) with
-                       | Some cols => ans_eqb a (ARows cols (rows_of t (d_data w)))
-                       | None => is_error a
-                       end
-           | None => is_error a
-           end
-         | _ => match a with ARows _ _ | AHist _ _ => want_commit r v t a | _ => true end   (* refusing is fine; rows must be the right ones *)
-         end
-t    if revdb_denotes r v then want_commit r v t a
-    else match (norm_base r (fst v), snd v) with
-         | (BBranch b, []) =>                         (* dirty branch: `db/branch` is the branch's working set *)
-           match branch_working r b with
-           | Some w => match assoc t (d_schema w) with
-                       | Some cols => ans_eqb a (ARows cols (rows_of t (d_data w)))
-                       | None => is_error a
-                       end
-           | None => is_error a
-           end
-         | _ => match a with ARows _ _ | AHist _ _ => want_commit r v t a | _ => true end   (* refusing is fine; rows must be the right ones *)
-         end
-h    if revdb_denotes r v then want_commit r v t a
-    else match (norm_base r (fst v), snd v) with
-         | (BBranch b, []) =>                         (* dirty branch: `db/branch` is the branch's working set *)
-           match branch_working r b with
-           | Some w => match assoc t (d_schema w) with
-                       | Some cols => ans_eqb a (ARows cols (rows_of t (d_data w)))
-                       | None => is_error a
-                       end
-           | None => is_error a
-           end
-         | _ => match a with ARows _ _ | AHist _ _ => want_commit r v t a | _ => true end   (* refusing is fine; rows must be the right ones *)
-         end
-
-    if revdb_denotes r v then want_commit r v t a
-    else match (norm_base r (fst v), snd v) with
-         | (BBranch b, []) =>                         (* dirty branch: `db/branch` is the branch's working set *)
-           match branch_working r b with
-           | Some w => match assoc t (d_schema w) with
-                       | Some cols => ans_eqb a (ARows cols (rows_of t (d_data w)))
-                       | None => is_error a
-                       end
-           | None => is_error a
-           end
-         | _ => match a with ARows _ _ | AHist _ _ => want_commit r v t a | _ => true end   (* refusing is fine; rows must be the right ones *)
-         end
-     if revdb_denotes r v then want_commit r v t a
-    else match (norm_base r (fst v), snd v) with
-         | (BBranch b, []) =>                         (* dirty branch: `db/branch` is the branch's working set *)
-           match branch_working r b with
-           | Some w => match assoc t (d_schema w) with
-                       | Some cols => ans_eqb a (ARows cols (rows_of t (d_data w)))
-                       | None => is_error a
-                       end
-           | None => is_error a
-           end
-         | _ => match a with ARows _ _ | AHist _ _ => want_commit r v t a | _ => true end   (* refusing is fine; rows must be the right ones *)
-         end
-     if revdb_denotes r v then want_commit r v t a
-    else match (norm_base r (fst v), snd v) with
-         | (BBranch b, []) =>                         (* dirty branch: `db/branch` is the branch's working set *)
-           match branch_working r b with
-           | Some w => match assoc t (d_schema w) with
-                       | Some cols => ans_eqb a (ARows cols (rows_of t (d_data w)))
-                       | None => is_error a
-                       end
-           | None => is_error a
-           end
-         | _ => match a with ARows _ _ | AHist _ _ => want_commit r v t a | _ => true end   (* refusing is fine; rows must be the right ones *)
-         end
-     if revdb_denotes r v then want_commit r v t a
-    else match (norm_base r (fst v), snd v) with
-         | (BBranch b, []) =>                         (* dirty branch: `db/branch` is the branch's working set *)
-           match branch_working r b with
-           | Some w => match assoc t (d_schema w) with
-                       | Some cols => ans_eqb a (ARows cols (rows_of t (d_data w)))
-                       | None => is_error a
-                       end
-           | None => is_error a
-           end
-         | _ => match a with ARows _ _ | AHist _ _ => want_commit r v t a | _ => true end   (* refusing is fine; rows must be the right ones *)
-         end
-     if revdb_denotes r v then want_commit r v t a
-    else match (norm_base r (fst v), snd v) with
-         | (BBranch b, []) =>                         (* dirty branch: `db/branch` is the branch's working set *)
-           match branch_working r b with
-           | Some w => match assoc t (d_schema w) with
-                       | Some cols => ans_eqb a (ARows cols (rows_of t (d_data w)))
-                       | None => is_error a
-                       end
-           | None => is_error a
-           end
-         | _ => match a with ARows _ _ | AHist _ _ => want_commit r v t a | _ => true end   (* refusing is fine; rows must be the right ones *)
-         end
-     if revdb_denotes r v then want_commit r v t a
-    else match (norm_base r (fst v), snd v) with
-         | (BBranch b, []) =>                         (* dirty branch: `db/branch` is the branch's working set *)
-           match branch_working r b with
-           | Some w => match assoc t (d_schema w) with
-                       | Some cols => ans_eqb a (ARows cols (rows_of t (d_data w)))
-                       | None => is_error a
-                       end
-           | None => is_error a
-           end
-         | _ => match a with ARows _ _ | AHist _ _ => want_commit r v t a | _ => true end   (* refusing is fine; rows must be the right ones *)
-         end
-     if revdb_denotes r v then want_commit r v t a
-    else match (norm_base r (fst v), snd v) with
-         | (BBranch b, []) =>                         (* dirty branch: `db/branch` is the branch's working set *)
-           match branch_working r b with
-           | Some w => match assoc t (d_schema w) with
-                       | Some cols => ans_eqb a (ARows cols (rows_of t (d_data w)))
-                       | None => is_error a
-                       end
-           | None => is_error a
-           end
-         | _ => match a with ARows _ _ | AHist _ _ => want_commit r v t a | _ => true end   (* refusing is fine; rows must be the right ones *)
-         end
-     if revdb_denotes r v then want_commit r v t a
-    else match (norm_base r (fst v), snd v) with
-         | (BBranch b, []) =>                         (* dirty branch: `db/branch` is the branch's working set *)
-           match branch_working r b with
-           | Some w => match assoc t (d_schema w) with
-                       | Some cols => ans_eqb a (ARows cols (rows_of t (d_data w)))
-                       | None => is_error a
-                       end
-           | None => is_error a
-           end
-         | _ => match a with ARows _ _ | AHist _ _ => want_commit r v t a | _ => true end   (* refusing is fine; rows must be the right ones *)
-         end
-     if revdb_denotes r v then want_commit r v t a
-    else match (norm_base r (fst v), snd v) with
-         | (BBranch b, []) =>                         (* dirty branch: `db/branch` is the branch's working set *)
-           match branch_working r b with
-           | Some w => match assoc t (d_schema w) with
-                       | Some cols => ans_eqb a (ARows cols (rows_of t (d_data w)))
-                       | None => is_error a
-                       end
-           | None => is_error a
-           end
-         | _ => match a with ARows _ _ | AHist _ _ => want_commit r v t a | _ => true end   (* refusing is fine; rows must be the right ones *)
-         end
-     if revdb_denotes r v then want_commit r v t a
-    else match (norm_base r (fst v), snd v) with
-         | (BBranch b, []) =>                         (* dirty branch: `db/branch` is the branch's working set *)
-           match branch_working r b with
-           | Some w => match assoc t (d_schema w) with
-                       | Some cols => ans_eqb a (ARows cols (rows_of t (d_data w)))
-                       | None => is_error a
-                       end
-           | None => is_error a
-           end
-         | _ => match a with ARows _ _ | AHist _ _ => want_commit r v t a | _ => true end   (* refusing is fine; rows must be the right ones *)
-         end
-|    if revdb_denotes r v then want_commit r v t a
-    else match (norm_base r (fst v), snd v) with
-         | (BBranch b, []) =>                         (* dirty branch: `db/branch` is the branch's working set *)
-           match branch_working r b with
-           | Some w => match assoc t (d_schema w) with
-                       | Some cols => ans_eqb a (ARows cols (rows_of t (d_data w)))
-                       | None => is_error a
-                       end
-           | None => is_error a
-           end
-         | _ => match a with ARows _ _ | AHist _ _ => want_commit r v t a | _ => true end   (* refusing is fine; rows must be the right ones *)
-         end
-     if revdb_denotes r v then want_commit r v t a
-    else match (norm_base r (fst v), snd v) with
-         | (BBranch b, []) =>                         (* dirty branch: `db/branch` is the branch's working set *)
-           match branch_working r b with
-           | Some w => match assoc t (d_schema w) with
-                       | Some cols => ans_eqb a (ARows cols (rows_of t (d_data w)))
-                       | None => is_error a
-                       end
-           | None => is_error a
-           end
-         | _ => match a with ARows _ _ | AHist _ _ => want_commit r v t a | _ => true end   (* refusing is fine; rows must be the right ones *)
-         end
-(    if revdb_denotes r v then want_commit r v t a
-    else match (norm_base r (fst v), snd v) with
-         | (BBranch b, []) =>                         (* dirty branch: `db/branch` is the branch's working set *)
-           match branch_working r b with
-           | Some w => match assoc t (d_schema w) with
-                       | Some cols => ans_eqb a (ARows cols (rows_of t (d_data w)))
-                       | None => is_error a
-                       end
-           | None => is_error a
-           end
-         | _ => match a with ARows _ _ | AHist _ _ => want_commit r v t a | _ => true end   (* refusing is fine; rows must be the right ones *)
-         end
-B    if revdb_denotes r v then want_commit r v t a
-    else match (norm_base r (fst v), snd v) with
-         | (BBranch b, []) =>                         (* dirty branch: `db/branch` is the branch's working set *)
-           match branch_working r b with
-           | Some w => match assoc t (d_schema w) with
-                       | Some cols => ans_eqb a (ARows cols (rows_of t (d_data w)))
-                       | None => is_error a
-                       end
-           | None => is_error a
-           end
-         | _ => match a with ARows _ _ | AHist _ _ => want_commit r v t a | _ => true end   (* refusing is fine; rows must be the right ones *)
-         end
-B    if revdb_denotes r v then want_commit r v t a
-    else match (norm_base r (fst v), snd v) with
-         | (BBranch b, []) =>                         (* dirty branch: `db/branch` is the branch's working set *)
-           match branch_working r b with
-           | Some w => match assoc t (d_schema w) with
-                       | Some cols => ans_eqb a (ARows cols (rows_of t (d_data w)))
-                       | None => is_error a
-                       end
-           | None => is_error a
-           end
-         | _ => match a with ARows _ _ | AHist _ _ => want_commit r v t a | _ => true end   (* refusing is fine; rows must be the right ones *)
-         end
-r    if revdb_denotes r v then want_commit r v t a
-    else match (norm_base r (fst v), snd v) with
-         | (BBranch b, []) =>                         (* dirty branch: `db/branch` is the branch's working set *)
-           match branch_working r b with
-           | Some w => match assoc t (d_schema w) with
-                       | Some cols => ans_eqb a (ARows cols (rows_of t (d_data w)))
-                       | None => is_error a
-                       end
-           | None => is_error a
-           end
-         | _ => match a with ARows _ _ | AHist _ _ => want_commit r v t a | _ => true end   (* refusing is fine; rows must be the right ones *)
-         end
-a    if revdb_denotes r v then want_commit r v t a
-    else match (norm_base r (fst v), snd v) with
-         | (BBranch b, []) =>                         (* dirty branch: `db/branch` is the branch's working set *)
-           match branch_working r b with
-           | Some w => match assoc t (d_schema w) with
-                       | Some cols => ans_eqb a (ARows cols (rows_of t (d_data w)))
-                       | None => is_error a
-                       end
-           | None => is_error a
-           end
-         | _ => match a with ARows _ _ | AHist _ _ => want_commit r v t a | _ => true end   (* refusing is fine; rows must be the right ones *)
-         end
-n    if revdb_denotes r v then want_commit r v t a
-    else match (norm_base r (fst v), snd v) with
-         | (BBranch b, []) =>                         (* dirty branch: `db/branch` is the branch's working set *)
-           match branch_working r b with
-           | Some w => match assoc t (d_schema w) with
-                       | Some cols => ans_eqb a (ARows cols (rows_of t (d_data w)))
-                       | None => is_error a
-                       end
-           | None => is_error a
-           end
-         | _ => match a with ARows _ _ | AHist _ _ => want_commit r v t a | _ => true end   (* refusing is fine; rows must be the right ones *)
-         end
-c    if revdb_denotes r v then want_commit r v t a
-    else match (norm_base r (fst v), snd v) with
-         | (BBranch b, []) =>                         (* dirty branch: `db/branch` is the branch's working set *)
-           match branch_working r b with
-           | Some w => match assoc t (d_schema w) with
-                       | Some cols => ans_eqb a (ARows cols (rows_of t (d_data w)))
-                       | None => is_error a
-                       end
-           | None => is_error a
-           end
-         | _ => match a with ARows _ _ | AHist _ _ => want_commit r v t a | _ => true end   (* refusing is fine; rows must be the right ones *)
-         end
-h    if revdb_denotes r v then want_commit r v t a
-    else match (norm_base r (fst v), snd v) with
-         | (BBranch b, []) =>                         (* dirty branch: `db/branch` is the branch's working set *)
-           match branch_working r b with
-           | Some w => match assoc t (d_schema w) with
-                       | Some cols => ans_eqb a (ARows cols (rows_of t (d_data w)))
-                       | None => is_error a
-                       end
-           | None => is_error a
-           end
-         | _ => match a with ARows _ _ | AHist _ _ => want_commit r v t a | _ => true end   (* refusing is fine; rows must be the right ones *)
-         end
-     if revdb_denotes r v then want_commit r v t a
-    else match (norm_base r (fst v), snd v) with
-         | (BBranch b, []) =>                         (* dirty branch: `db/branch` is the branch's working set *)
-           match branch_working r b with
-           | Some w => match assoc t (d_schema w) with
-                       | Some cols => ans_eqb a (ARows cols (rows_of t (d_data w)))
-                       | None => is_error a
-                       end
-           | None => is_error a
-           end
-         | _ => match a with ARows _ _ | AHist _ _ => want_commit r v t a | _ => true end   (* refusing is fine; rows must be the right ones *)
-         end
-_    if revdb_denotes r v then want_commit r v t a
-    else match (norm_base r (fst v), snd v) with
-         | (BBranch b, []) =>                         (* dirty branch: `db/branch` is the branch's working set *)
-           match branch_working r b with
-           | Some w => match assoc t (d_schema w) with
-                       | Some cols => ans_eqb a (ARows cols (rows_of t (d_data w)))
-                       | None => is_error a
-                       end
-           | None => is_error a
-           end
-         | _ => match a with ARows _ _ | AHist _ _ => want_commit r v t a | _ => true end   (* refusing is fine; rows must be the right ones *)
-         end
-,    if revdb_denotes r v then want_commit r v t a
-    else match (norm_base r (fst v), snd v) with
-         | (BBranch b, []) =>                         (* dirty branch: `db/branch` is the branch's working set *)
-           match branch_working r b with
-           | Some w => match assoc t (d_schema w) with
-                       | Some cols => ans_eqb a (ARows cols (rows_of t (d_data w)))
-                       | None => is_error a
-                       end
-           | None => is_error a
-           end
-         | _ => match a with ARows _ _ | AHist _ _ => want_commit r v t a | _ => true end   (* refusing is fine; rows must be the right ones *)
-         end
-     if revdb_denotes r v then want_commit r v t a
-    else match (norm_base r (fst v), snd v) with
-         | (BBranch b, []) =>                         (* dirty branch: `db/branch` is the branch's working set *)
-           match branch_working r b with
-           | Some w => match assoc t (d_schema w) with
-                       | Some cols => ans_eqb a (ARows cols (rows_of t (d_data w)))
-                       | None => is_error a
-                       end
-           | None => is_error a
-           end
-         | _ => match a with ARows _ _ | AHist _ _ => want_commit r v t a | _ => true end   (* refusing is fine; rows must be the right ones *)
-         end
-[    if revdb_denotes r v then want_commit r v t a
-    else match (norm_base r (fst v), snd v) with
-         | (BBranch b, []) =>                         (* dirty branch: `db/branch` is the branch's working set *)
-           match branch_working r b with
-           | Some w => match assoc t (d_schema w) with
-                       | Some cols => ans_eqb a (ARows cols (rows_of t (d_data w)))
-                       | None => is_error a
-                       end
-           | None => is_error a
-           end
-         | _ => match a with ARows _ _ | AHist _ _ => want_commit r v t a | _ => true end   (* refusing is fine; rows must be the right ones *)
-         end
-]    if revdb_denotes r v then want_commit r v t a
-    else match (norm_base r (fst v), snd v) with
-         | (BBranch b, []) =>                         (* dirty branch: `db/branch` is the branch's working set *)
-           match branch_working r b with
-           | Some w => match assoc t (d_schema w) with
-                       | Some cols => ans_eqb a (ARows cols (rows_of t (d_data w)))
-                       | None => is_error a
-                       end
-           | None => is_error a
-           end
-         | _ => match a with ARows _ _ | AHist _ _ => want_commit r v t a | _ => true end   (* refusing is fine; rows must be the right ones *)
-         end
-)    if revdb_denotes r v then want_commit r v t a
-    else match (norm_base r (fst v), snd v) with
-         | (BBranch b, []) =>                         (* dirty branch: `db/branch` is the branch's working set *)
-           match branch_working r b with
-           | Some w => match assoc t (d_schema w) with
-                       | Some cols => ans_eqb a (ARows cols (rows_of t (d_data w)))
-                       | None => is_error a
-                       end
-           | None => is_error a
-           end
-         | _ => match a with ARows _ _ | AHist _ _ => want_commit r v t a | _ => true end   (* refusing is fine; rows must be the right ones *)
-         end
-     if revdb_denotes r v then want_commit r v t a
-    else match (norm_base r (fst v), snd v) with
-         | (BBranch b, []) =>                         (* dirty branch: `db/branch` is the branch's working set *)
-           match branch_working r b with
-           | Some w => match assoc t (d_schema w) with
-                       | Some cols => ans_eqb a (ARows cols (rows_of t (d_data w)))
-                       | None => is_error a
-                       end
-           | None => is_error a
-           end
-         | _ => match a with ARows _ _ | AHist _ _ => want_commit r v t a | _ => true end   (* refusing is fine; rows must be the right ones *)
-         end
-=    if revdb_denotes r v then want_commit r v t a
-    else match (norm_base r (fst v), snd v) with
-         | (BBranch b, []) =>                         (* dirty branch: `db/branch` is the branch's working set *)
-           match branch_working r b with
-           | Some w => match assoc t (d_schema w) with
-                       | Some cols => ans_eqb a (ARows cols (rows_of t (d_data w)))
-                       | None => is_error a
-                       end
-           | None => is_error a
-           end
-         | _ => match a with ARows _ _ | AHist _ _ => want_commit r v t a | _ => true end   (* refusing is fine; rows must be the right ones *)
-         end
->    if revdb_denotes r v then want_commit r v t a
-    else match (norm_base r (fst v), snd v) with
-         | (BBranch b, []) =>                         (* dirty branch: `db/branch` is the branch's working set *)
-           match branch_working r b with
-           | Some w => match assoc t (d_schema w) with
-                       | Some cols => ans_eqb a (ARows cols (rows_of t (d_data w)))
-                       | None => is_error a
-                       end
-           | None => is_error a
-           end
-         | _ => match a with ARows _ _ | AHist _ _ => want_commit r v t a | _ => true end   (* refusing is fine; rows must be the right ones *)
-         end
-     if revdb_denotes r v then want_commit r v t a
-    else match (norm_base r (fst v), snd v) with
-         | (BBranch b, []) =>                         (* dirty branch: `db/branch` is the branch's working set *)
-           match branch_working r b with
-           | Some w => match assoc t (d_schema w) with
-                       | Some cols => ans_eqb a (ARows cols (rows_of t (d_data w)))
-                       | None => is_error a
-                       end
-           | None => is_error a
-           end
-         | _ => match a with ARows _ _ | AHist _ _ => want_commit r v t a | _ => true end   (* refusing is fine; rows must be the right ones *)
-         end
-t    if revdb_denotes r v then want_commit r v t a
-    else match (norm_base r (fst v), snd v) with
-         | (BBranch b, []) =>                         (* dirty branch: `db/branch` is the branch's working set *)
-           match branch_working r b with
-           | Some w => match assoc t (d_schema w) with
-                       | Some cols => ans_eqb a (ARows cols (rows_of t (d_data w)))
-                       | None => is_error a
-                       end
-           | None => is_error a
-           end
-         | _ => match a with ARows _ _ | AHist _ _ => want_commit r v t a | _ => true end   (* refusing is fine; rows must be the right ones *)
-         end
-r    if revdb_denotes r v then want_commit r v t a
-    else match (norm_base r (fst v), snd v) with
-         | (BBranch b, []) =>                         (* dirty branch: `db/branch` is the branch's working set *)
-           match branch_working r b with
-           | Some w => match assoc t (d_schema w) with
-                       | Some cols => ans_eqb a (ARows cols (rows_of t (d_data w)))
-                       | None => is_error a
-                       end
-           | None => is_error a
-           end
-         | _ => match a with ARows _ _ | AHist _ _ => want_commit r v t a | _ => true end   (* refusing is fine; rows must be the right ones *)
-         end
-u    if revdb_denotes r v then want_commit r v t a
-    else match (norm_base r (fst v), snd v) with
-         | (BBranch b, []) =>                         (* dirty branch: `db/branch` is the branch's working set *)
-           match branch_working r b with
-           | Some w => match assoc t (d_schema w) with
-                       | Some cols => ans_eqb a (ARows cols (rows_of t (d_data w)))
-                       | None => is_error a
-                       end
-           | None => is_error a
-           end
-         | _ => match a with ARows _ _ | AHist _ _ => want_commit r v t a | _ => true end   (* refusing is fine; rows must be the right ones *)
-         end
-e    if revdb_denotes r v then want_commit r v t a
-    else match (norm_base r (fst v), snd v) with
-         | (BBranch b, []) =>                         (* dirty branch: `db/branch` is the branch's working set *)
-           match branch_working r b with
-           | Some w => match assoc t (d_schema w) with
-                       | Some cols => ans_eqb a (ARows cols (rows_of t (d_data w)))
-                       | None => is_error a
-                       end
-           | None => is_error a
-           end
-         | _ => match a with ARows _ _ | AHist _ _ => want_commit r v t a | _ => true end   (* refusing is fine; rows must be the right ones *)
-         end
-     if revdb_denotes r v then want_commit r v t a
-    else match (norm_base r (fst v), snd v) with
-         | (BBranch b, []) =>                         (* dirty branch: `db/branch` is the branch's working set *)
-           match branch_working r b with
-           | Some w => match assoc t (d_schema w) with
-                       | Some cols => ans_eqb a (ARows cols (rows_of t (d_data w)))
-                       | None => is_error a
-                       end
-           | None => is_error a
-           end
-         | _ => match a with ARows _ _ | AHist _ _ => want_commit r v t a | _ => true end   (* refusing is fine; rows must be the right ones *)
-         end
-     if revdb_denotes r v then want_commit r v t a
-    else match (norm_base r (fst v), snd v) with
-         | (BBranch b, []) =>                         (* dirty branch: `db/branch` is the branch's working set *)
-           match branch_working r b with
-           | Some w => match assoc t (d_schema w) with
-                       | Some cols => ans_eqb a (ARows cols (rows_of t (d_data w)))
-                       | None => is_error a
-                       end
-           | None => is_error a
-           end
-         | _ => match a with ARows _ _ | AHist _ _ => want_commit r v t a | _ => true end   (* refusing is fine; rows must be the right ones *)
-         end
-     if revdb_denotes r v then want_commit r v t a
-    else match (norm_base r (fst v), snd v) with
-         | (BBranch b, []) =>                         (* dirty branch: `db/branch` is the branch's working set *)
-           match branch_working r b with
-           | Some w => match assoc t (d_schema w) with
-                       | Some cols => ans_eqb a (ARows cols (rows_of t (d_data w)))
-                       | None => is_error a
-                       end
-           | None => is_error a
-           end
-         | _ => match a with ARows _ _ | AHist _ _ => want_commit r v t a | _ => true end   (* refusing is fine; rows must be the right ones *)
-         end
-     if revdb_denotes r v then want_commit r v t a
-    else match (norm_base r (fst v), snd v) with
-         | (BBranch b, []) =>                         (* dirty branch: `db/branch` is the branch's working set *)
-           match branch_working r b with
-           | Some w => match assoc t (d_schema w) with
-                       | Some cols => ans_eqb a (ARows cols (rows_of t (d_data w)))
-                       | None => is_error a
-                       end
-           | None => is_error a
-           end
-         | _ => match a with ARows _ _ | AHist _ _ => want_commit r v t a | _ => true end   (* refusing is fine; rows must be the right ones *)
-         end
-     if revdb_denotes r v then want_commit r v t a
-    else match (norm_base r (fst v), snd v) with
-         | (BBranch b, []) =>                         (* dirty branch: `db/branch` is the branch's working set *)
-           match branch_working r b with
-           | Some w => match assoc t (d_schema w) with
-                       | Some cols => ans_eqb a (ARows cols (rows_of t (d_data w)))
-                       | None => is_error a
-                       end
-           | None => is_error a
-           end
-         | _ => match a with ARows _ _ | AHist _ _ => want_commit r v t a | _ => true end   (* refusing is fine; rows must be the right ones *)
-         end
-     if revdb_denotes r v then want_commit r v t a
-    else match (norm_base r (fst v), snd v) with
-         | (BBranch b, []) =>                         (* dirty branch: `db/branch` is the branch's working set *)
-           match branch_working r b with
-           | Some w => match assoc t (d_schema w) with
-                       | Some cols => ans_eqb a (ARows cols (rows_of t (d_data w)))
-                       | None => is_error a
-                       end
-           | None => is_error a
-           end
-         | _ => match a with ARows _ _ | AHist _ _ => want_commit r v t a | _ => true end   (* refusing is fine; rows must be the right ones *)
-         end
-     if revdb_denotes r v then want_commit r v t a
-    else match (norm_base r (fst v), snd v) with
-         | (BBranch b, []) =>                         (* dirty branch: `db/branch` is the branch's working set *)
-           match branch_working r b with
-           | Some w => match assoc t (d_schema w) with
-                       | Some cols => ans_eqb a (ARows cols (rows_of t (d_data w)))
-                       | None => is_error a
-                       end
-           | None => is_error a
-           end
-         | _ => match a with ARows _ _ | AHist _ _ => want_commit r v t a | _ => true end   (* refusing is fine; rows must be the right ones *)
-         end
-     if revdb_denotes r v then want_commit r v t a
-    else match (norm_base r (fst v), snd v) with
-         | (BBranch b, []) =>                         (* dirty branch: `db/branch` is the branch's working set *)
-           match branch_working r b with
-           | Some w => match assoc t (d_schema w) with
-                       | Some cols => ans_eqb a (ARows cols (rows_of t (d_data w)))
-                       | None => is_error a
-                       end
-           | None => is_error a
-           end
-         | _ => match a with ARows _ _ | AHist _ _ => want_commit r v t a | _ => true end   (* refusing is fine; rows must be the right ones *)
-         end
-     if revdb_denotes r v then want_commit r v t a
-    else match (norm_base r (fst v), snd v) with
-         | (BBranch b, []) =>                         (* dirty branch: `db/branch` is the branch's working set *)
-           match branch_working r b with
-           | Some w => match assoc t (d_schema w) with
-                       | Some cols => ans_eqb a (ARows cols (rows_of t (d_data w)))
-                       | None => is_error a
-                       end
-           | None => is_error a
-           end
-         | _ => match a with ARows _ _ | AHist _ _ => want_commit r v t a | _ => true end   (* refusing is fine; rows must be the right ones *)
-         end
-     if revdb_denotes r v then want_commit r v t a
-    else match (norm_base r (fst v), snd v) with
-         | (BBranch b, []) =>                         (* dirty branch: `db/branch` is the branch's working set *)
-           match branch_working r b with
-           | Some w => match assoc t (d_schema w) with
-                       | Some cols => ans_eqb a (ARows cols (rows_of t (d_data w)))
-                       | None => is_error a
-                       end
-           | None => is_error a
-           end
-         | _ => match a with ARows _ _ | AHist _ _ => want_commit r v t a | _ => true end   (* refusing is fine; rows must be the right ones *)
-         end
-     if revdb_denotes r v then want_commit r v t a
-    else match (norm_base r (fst v), snd v) with
-         | (BBranch b, []) =>                         (* dirty branch: `db/branch` is the branch's working set *)
-           match branch_working r b with
-           | Some w => match assoc t (d_schema w) with
-                       | Some cols => ans_eqb a (ARows cols (rows_of t (d_data w)))
-                       | None => is_error a
-                       end
-           | None => is_error a
-           end
-         | _ => match a with ARows _ _ | AHist _ _ => want_commit r v t a | _ => true end   (* refusing is fine; rows must be the right ones *)
-         end
-     if revdb_denotes r v then want_commit r v t a
-    else match (norm_base r (fst v), snd v) with
-         | (BBranch b, []) =>                         (* dirty branch: `db/branch` is the branch's working set *)
-           match branch_working r b with
-           | Some w => match assoc t (d_schema w) with
-                       | Some cols => ans_eqb a (ARows cols (rows_of t (d_data w)))
-                       | None => is_error a
-                       end
-           | None => is_error a
-           end
-         | _ => match a with ARows _ _ | AHist _ _ => want_commit r v t a | _ => true end   (* refusing is fine; rows must be the right ones *)
-         end
-     if revdb_denotes r v then want_commit r v t a
-    else match (norm_base r (fst v), snd v) with
-         | (BBranch b, []) =>                         (* dirty branch: `db/branch` is the branch's working set *)
-           match branch_working r b with
-           | Some w => match assoc t (d_schema w) with
-                       | Some cols => ans_eqb a (ARows cols (rows_of t (d_data w)))
-                       | None => is_error a
-                       end
-           | None => is_error a
-           end
-         | _ => match a with ARows _ _ | AHist _ _ => want_commit r v t a | _ => true end   (* refusing is fine; rows must be the right ones *)
-         end
-     if revdb_denotes r v then want_commit r v t a
-    else match (norm_base r (fst v), snd v) with
-         | (BBranch b, []) =>                         (* dirty branch: `db/branch` is the branch's working set *)
-           match branch_working r b with
-           | Some w => match assoc t (d_schema w) with
-                       | Some cols => ans_eqb a (ARows cols (rows_of t (d_data w)))
-                       | None => is_error a
-                       end
-           | None => is_error a
-           end
-         | _ => match a with ARows _ _ | AHist _ _ => want_commit r v t a | _ => true end   (* refusing is fine; rows must be the right ones *)
-         end
-     if revdb_denotes r v then want_commit r v t a
-    else match (norm_base r (fst v), snd v) with
-         | (BBranch b, []) =>                         (* dirty branch: `db/branch` is the branch's working set *)
-           match branch_working r b with
-           | Some w => match assoc t (d_schema w) with
-                       | Some cols => ans_eqb a (ARows cols (rows_of t (d_data w)))
-                       | None => is_error a
-                       end
-           | None => is_error a
-           end
-         | _ => match a with ARows _ _ | AHist _ _ => want_commit r v t a | _ => true end   (* refusing is fine; rows must be the right ones *)
-         end
-     if revdb_denotes r v then want_commit r v t a
-    else match (norm_base r (fst v), snd v) with
-         | (BBranch b, []) =>                         (* dirty branch: `db/branch` is the branch's working set *)
-           match branch_working r b with
-           | Some w => match assoc t (d_schema w) with
-                       | Some cols => ans_eqb a (ARows cols (rows_of t (d_data w)))
-                       | None => is_error a
-                       end
-           | None => is_error a
-           end
-         | _ => match a with ARows _ _ | AHist _ _ => want_commit r v t a | _ => true end   (* refusing is fine; rows must be the right ones *)
-         end
-     if revdb_denotes r v then want_commit r v t a
-    else match (norm_base r (fst v), snd v) with
-         | (BBranch b, []) =>                         (* dirty branch: `db/branch` is the branch's working set *)
-           match branch_working r b with
-           | Some w => match assoc t (d_schema w) with
-                       | Some cols => ans_eqb a (ARows cols (rows_of t (d_data w)))
-                       | None => is_error a
-                       end
-           | None => is_error a
-           end
-         | _ => match a with ARows _ _ | AHist _ _ => want_commit r v t a | _ => true end   (* refusing is fine; rows must be the right ones *)
-         end
-     if revdb_denotes r v then want_commit r v t a
-    else match (norm_base r (fst v), snd v) with
-         | (BBranch b, []) =>                         (* dirty branch: `db/branch` is the branch's working set *)
-           match branch_working r b with
-           | Some w => match assoc t (d_schema w) with
-                       | Some cols => ans_eqb a (ARows cols (rows_of t (d_data w)))
-                       | None => is_error a
-                       end
-           | None => is_error a
-           end
-         | _ => match a with ARows _ _ | AHist _ _ => want_commit r v t a | _ => true end   (* refusing is fine; rows must be the right ones *)
-         end
-     if revdb_denotes r v then want_commit r v t a
-    else match (norm_base r (fst v), snd v) with
-         | (BBranch b, []) =>                         (* dirty branch: `db/branch` is the branch's working set *)
-           match branch_working r b with
-           | Some w => match assoc t (d_schema w) with
-                       | Some cols => ans_eqb a (ARows cols (rows_of t (d_data w)))
-                       | None => is_error a
-                       end
-           | None => is_error a
-           end
-         | _ => match a with ARows _ _ | AHist _ _ => want_commit r v t a | _ => true end   (* refusing is fine; rows must be the right ones *)
-         end
-     if revdb_denotes r v then want_commit r v t a
-    else match (norm_base r (fst v), snd v) with
-         | (BBranch b, []) =>                         (* dirty branch: `db/branch` is the branch's working set *)
-           match branch_working r b with
-           | Some w => match assoc t (d_schema w) with
-                       | Some cols => ans_eqb a (ARows cols (rows_of t (d_data w)))
-                       | None => is_error a
-                       end
-           | None => is_error a
-           end
-         | _ => match a with ARows _ _ | AHist _ _ => want_commit r v t a | _ => true end   (* refusing is fine; rows must be the right ones *)
-         end
-(    if revdb_denotes r v then want_commit r v t a
-    else match (norm_base r (fst v), snd v) with
-         | (BBranch b, []) =>                         (* dirty branch: `db/branch` is the branch's working set *)
-           match branch_working r b with
-           | Some w => match assoc t (d_schema w) with
-                       | Some cols => ans_eqb a (ARows cols (rows_of t (d_data w)))
-                       | None => is_error a
-                       end
-           | None => is_error a
-           end
-         | _ => match a with ARows _ _ | AHist _ _ => want_commit r v t a | _ => true end   (* refusing is fine; rows must be the right ones *)
-         end
-*    if revdb_denotes r v then want_commit r v t a
-    else match (norm_base r (fst v), snd v) with
-         | (BBranch b, []) =>                         (* dirty branch: `db/branch` is the branch's working set *)
-           match branch_working r b with
-           | Some w => match assoc t (d_schema w) with
-                       | Some cols => ans_eqb a (ARows cols (rows_of t (d_data w)))
-                       | None => is_error a
-                       end
-           | None => is_error a
-           end
-         | _ => match a with ARows _ _ | AHist _ _ => want_commit r v t a | _ => true end   (* refusing is fine; rows must be the right ones *)
-         end
-     if revdb_denotes r v then want_commit r v t a
-    else match (norm_base r (fst v), snd v) with
-         | (BBranch b, []) =>                         (* dirty branch: `db/branch` is the branch's working set *)
-           match branch_working r b with
-           | Some w => match assoc t (d_schema w) with
-                       | Some cols => ans_eqb a (ARows cols (rows_of t (d_data w)))
-                       | None => is_error a
-                       end
-           | None => is_error a
-           end
-         | _ => match a with ARows _ _ | AHist _ _ => want_commit r v t a | _ => true end   (* refusing is fine; rows must be the right ones *)
-         end
-d    if revdb_denotes r v then want_commit r v t a
-    else match (norm_base r (fst v), snd v) with
-         | (BBranch b, []) =>                         (* dirty branch: `db/branch` is the branch's working set *)
-           match branch_working r b with
-           | Some w => match assoc t (d_schema w) with
-                       | Some cols => ans_eqb a (ARows cols (rows_of t (d_data w)))
-                       | None => is_error a
-                       end
-           | None => is_error a
-           end
-         | _ => match a with ARows _ _ | AHist _ _ => want_commit r v t a | _ => true end   (* refusing is fine; rows must be the right ones *)
-         end
-i    if revdb_denotes r v then want_commit r v t a
-    else match (norm_base r (fst v), snd v) with
-         | (BBranch b, []) =>                         (* dirty branch: `db/branch` is the branch's working set *)
-           match branch_working r b with
-           | Some w => match assoc t (d_schema w) with
-                       | Some cols => ans_eqb a (ARows cols (rows_of t (d_data w)))
-                       | None => is_error a
-                       end
-           | None => is_error a
-           end
-         | _ => match a with ARows _ _ | AHist _ _ => want_commit r v t a | _ => true end   (* refusing is fine; rows must be the right ones *)
-         end
-r    if revdb_denotes r v then want_commit r v t a
-    else match (norm_base r (fst v), snd v) with
-         | (BBranch b, []) =>                         (* dirty branch: `db/branch` is the branch's working set *)
-           match branch_working r b with
-           | Some w => match assoc t (d_schema w) with
-                       | Some cols => ans_eqb a (ARows cols (rows_of t (d_data w)))
-                       | None => is_error a
-                       end
-           | None => is_error a
-           end
-         | _ => match a with ARows _ _ | AHist _ _ => want_commit r v t a | _ => true end   (* refusing is fine; rows must be the right ones *)
-         end
-t    if revdb_denotes r v then want_commit r v t a
-    else match (norm_base r (fst v), snd v) with
-         | (BBranch b, []) =>                         (* dirty branch: `db/branch` is the branch's working set *)
-           match branch_working r b with
-           | Some w => match assoc t (d_schema w) with
-                       | Some cols => ans_eqb a (ARows cols (rows_of t (d_data w)))
-                       | None => is_error a
-                       end
-           | None => is_error a
-           end
-         | _ => match a with ARows _ _ | AHist _ _ => want_commit r v t a | _ => true end   (* refusing is fine; rows must be the right ones *)
-         end
-y    if revdb_denotes r v then want_commit r v t a
-    else match (norm_base r (fst v), snd v) with
-         | (BBranch b, []) =>                         (* dirty branch: `db/branch` is the branch's working set *)
-           match branch_working r b with
-           | Some w => match assoc t (d_schema w) with
-                       | Some cols => ans_eqb a (ARows cols (rows_of t (d_data w)))
-                       | None => is_error a
-                       end
-           | None => is_error a
-           end
-         | _ => match a with ARows _ _ | AHist _ _ => want_commit r v t a | _ => true end   (* refusing is fine; rows must be the right ones *)
-         end
-     if revdb_denotes r v then want_commit r v t a
-    else match (norm_base r (fst v), snd v) with
-         | (BBranch b, []) =>                         (* dirty branch: `db/branch` is the branch's working set *)
-           match branch_working r b with
-           | Some w => match assoc t (d_schema w) with
-                       | Some cols => ans_eqb a (ARows cols (rows_of t (d_data w)))
-                       | None => is_error a
-                       end
-           | None => is_error a
-           end
-         | _ => match a with ARows _ _ | AHist _ _ => want_commit r v t a | _ => true end   (* refusing is fine; rows must be the right ones *)
-         end
-b    if revdb_denotes r v then want_commit r v t a
-    else match (norm_base r (fst v), snd v) with
-         | (BBranch b, []) =>                         (* dirty branch: `db/branch` is the branch's working set *)
-           match branch_working r b with
-           | Some w => match assoc t (d_schema w) with
-                       | Some cols => ans_eqb a (ARows cols (rows_of t (d_data w)))
-                       | None => is_error a
-                       end
-           | None => is_error a
-           end
-         | _ => match a with ARows _ _ | AHist _ _ => want_commit r v t a | _ => true end   (* refusing is fine; rows must be the right ones *)
-         end
-r    if revdb_denotes r v then want_commit r v t a
-    else match (norm_base r (fst v), snd v) with
-         | (BBranch b, []) =>                         (* dirty branch: `db/branch` is the branch's working set *)
-           match branch_working r b with
-           | Some w => match assoc t (d_schema w) with
-                       | Some cols => ans_eqb a (ARows cols (rows_of t (d_data w)))
-                       | None => is_error a
-                       end
-           | None => is_error a
-           end
-         | _ => match a with ARows _ _ | AHist _ _ => want_commit r v t a | _ => true end   (* refusing is fine; rows must be the right ones *)
-         end
-a    if revdb_denotes r v then want_commit r v t a
-    else match (norm_base r (fst v), snd v) with
-         | (BBranch b, []) =>                         (* dirty branch: `db/branch` is the branch's working set *)
-           match branch_working r b with
-           | Some w => match assoc t (d_schema w) with
-                       | Some cols => ans_eqb a (ARows cols (rows_of t (d_data w)))
-                       | None => is_error a
-                       end
-           | None => is_error a
-           end
-         | _ => match a with ARows _ _ | AHist _ _ => want_commit r v t a | _ => true end   (* refusing is fine; rows must be the right ones *)
-         end
-n    if revdb_denotes r v then want_commit r v t a
-    else match (norm_base r (fst v), snd v) with
-         | (BBranch b, []) =>                         (* dirty branch: `db/branch` is the branch's working set *)
-           match branch_working r b with
-           | Some w => match assoc t (d_schema w) with
-                       | Some cols => ans_eqb a (ARows cols (rows_of t (d_data w)))
-                       | None => is_error a
-                       end
-           | None => is_error a
-           end
-         | _ => match a with ARows _ _ | AHist _ _ => want_commit r v t a | _ => true end   (* refusing is fine; rows must be the right ones *)
-         end
-c    if revdb_denotes r v then want_commit r v t a
-    else match (norm_base r (fst v), snd v) with
-         | (BBranch b, []) =>                         (* dirty branch: `db/branch` is the branch's working set *)
-           match branch_working r b with
-           | Some w => match assoc t (d_schema w) with
-                       | Some cols => ans_eqb a (ARows cols (rows_of t (d_data w)))
-                       | None => is_error a
-                       end
-           | None => is_error a
-           end
-         | _ => match a with ARows _ _ | AHist _ _ => want_commit r v t a | _ => true end   (* refusing is fine; rows must be the right ones *)
-         end
-h    if revdb_denotes r v then want_commit r v t a
-    else match (norm_base r (fst v), snd v) with
-         | (BBranch b, []) =>                         (* dirty branch: `db/branch` is the branch's working set *)
-           match branch_working r b with
-           | Some w => match assoc t (d_schema w) with
-                       | Some cols => ans_eqb a (ARows cols (rows_of t (d_data w)))
-                       | None => is_error a
-                       end
-           | None => is_error a
-           end
-         | _ => match a with ARows _ _ | AHist _ _ => want_commit r v t a | _ => true end   (* refusing is fine; rows must be the right ones *)
-         end
-:    if revdb_denotes r v then want_commit r v t a
-    else match (norm_base r (fst v), snd v) with
-         | (BBranch b, []) =>                         (* dirty branch: `db/branch` is the branch's working set *)
-           match branch_working r b with
-           | Some w => match assoc t (d_schema w) with
-                       | Some cols => ans_eqb a (ARows cols (rows_of t (d_data w)))
-                       | None => is_error a
-                       end
-           | None => is_error a
-           end
-         | _ => match a with ARows _ _ | AHist _ _ => want_commit r v t a | _ => true end   (* refusing is fine; rows must be the right ones *)
-         end
-     if revdb_denotes r v then want_commit r v t a
-    else match (norm_base r (fst v), snd v) with
-         | (BBranch b, []) =>                         (* dirty branch: `db/branch` is the branch's working set *)
-           match branch_working r b with
-           | Some w => match assoc t (d_schema w) with
-                       | Some cols => ans_eqb a (ARows cols (rows_of t (d_data w)))
-                       | None => is_error a
-                       end
-           | None => is_error a
-           end
-         | _ => match a with ARows _ _ | AHist _ _ => want_commit r v t a | _ => true end   (* refusing is fine; rows must be the right ones *)
-         end
-i    if revdb_denotes r v then want_commit r v t a
-    else match (norm_base r (fst v), snd v) with
-         | (BBranch b, []) =>                         (* dirty branch: `db/branch` is the branch's working set *)
-           match branch_working r b with
-           | Some w => match assoc t (d_schema w) with
-                       | Some cols => ans_eqb a (ARows cols (rows_of t (d_data w)))
-                       | None => is_error a
-                       end
-           | None => is_error a
-           end
-         | _ => match a with ARows _ _ | AHist _ _ => want_commit r v t a | _ => true end   (* refusing is fine; rows must be the right ones *)
-         end
-t    if revdb_denotes r v then want_commit r v t a
-    else match (norm_base r (fst v), snd v) with
-         | (BBranch b, []) =>                         (* dirty branch: `db/branch` is the branch's working set *)
-           match branch_working r b with
-           | Some w => match assoc t (d_schema w) with
-                       | Some cols => ans_eqb a (ARows cols (rows_of t (d_data w)))
-                       | None => is_error a
-                       end
-           | None => is_error a
-           end
-         | _ => match a with ARows _ _ | AHist _ _ => want_commit r v t a | _ => true end   (* refusing is fine; rows must be the right ones *)
-         end
-s    if revdb_denotes r v then want_commit r v t a
-    else match (norm_base r (fst v), snd v) with
-         | (BBranch b, []) =>                         (* dirty branch: `db/branch` is the branch's working set *)
-           match branch_working r b with
-           | Some w => match assoc t (d_schema w) with
-                       | Some cols => ans_eqb a (ARows cols (rows_of t (d_data w)))
-                       | None => is_error a
-                       end
-           | None => is_error a
-           end
-         | _ => match a with ARows _ _ | AHist _ _ => want_commit r v t a | _ => true end   (* refusing is fine; rows must be the right ones *)
-         end
-     if revdb_denotes r v then want_commit r v t a
-    else match (norm_base r (fst v), snd v) with
-         | (BBranch b, []) =>                         (* dirty branch: `db/branch` is the branch's working set *)
-           match branch_working r b with
-           | Some w => match assoc t (d_schema w) with
-                       | Some cols => ans_eqb a (ARows cols (rows_of t (d_data w)))
-                       | None => is_error a
-                       end
-           | None => is_error a
-           end
-         | _ => match a with ARows _ _ | AHist _ _ => want_commit r v t a | _ => true end   (* refusing is fine; rows must be the right ones *)
-         end
-w    if revdb_denotes r v then want_commit r v t a
-    else match (norm_base r (fst v), snd v) with
-         | (BBranch b, []) =>                         (* dirty branch: `db/branch` is the branch's working set *)
-           match branch_working r b with
-           | Some w => match assoc t (d_schema w) with
-                       | Some cols => ans_eqb a (ARows cols (rows_of t (d_data w)))
-                       | None => is_error a
-                       end
-           | None => is_error a
-           end
-         | _ => match a with ARows _ _ | AHist _ _ => want_commit r v t a | _ => true end   (* refusing is fine; rows must be the right ones *)
-         end
-o    if revdb_denotes r v then want_commit r v t a
-    else match (norm_base r (fst v), snd v) with
-         | (BBranch b, []) =>                         (* dirty branch: `db/branch` is the branch's working set *)
-           match branch_working r b with
-           | Some w => match assoc t (d_schema w) with
-                       | Some cols => ans_eqb a (ARows cols (rows_of t (d_data w)))
-                       | None => is_error a
-                       end
-           | None => is_error a
-           end
-         | _ => match a with ARows _ _ | AHist _ _ => want_commit r v t a | _ => true end   (* refusing is fine; rows must be the right ones *)
-         end
-r    if revdb_denotes r v then want_commit r v t a
-    else match (norm_base r (fst v), snd v) with
-         | (BBranch b, []) =>                         (* dirty branch: `db/branch` is the branch's working set *)
-           match branch_working r b with
-           | Some w => match assoc t (d_schema w) with
-                       | Some cols => ans_eqb a (ARows cols (rows_of t (d_data w)))
-                       | None => is_error a
-                       end
-           | None => is_error a
-           end
-         | _ => match a with ARows _ _ | AHist _ _ => want_commit r v t a | _ => true end   (* refusing is fine; rows must be the right ones *)
-         end
-k    if revdb_denotes r v then want_commit r v t a
-    else match (norm_base r (fst v), snd v) with
-         | (BBranch b, []) =>                         (* dirty branch: `db/branch` is the branch's working set *)
-           match branch_working r b with
-           | Some w => match assoc t (d_schema w) with
-                       | Some cols => ans_eqb a (ARows cols (rows_of t (d_data w)))
-                       | None => is_error a
-                       end
-           | None => is_error a
-           end
-         | _ => match a with ARows _ _ | AHist _ _ => want_commit r v t a | _ => true end   (* refusing is fine; rows must be the right ones *)
-         end
-i    if revdb_denotes r v then want_commit r v t a
-    else match (norm_base r (fst v), snd v) with
-         | (BBranch b, []) =>                         (* dirty branch: `db/branch` is the branch's working set *)
-           match branch_working r b with
-           | Some w => match assoc t (d_schema w) with
-                       | Some cols => ans_eqb a (ARows cols (rows_of t (d_data w)))
-                       | None => is_error a
-                       end
-           | None => is_error a
-           end
-         | _ => match a with ARows _ _ | AHist _ _ => want_commit r v t a | _ => true end   (* refusing is fine; rows must be the right ones *)
-         end
-n    if revdb_denotes r v then want_commit r v t a
-    else match (norm_base r (fst v), snd v) with
-         | (BBranch b, []) =>                         (* dirty branch: `db/branch` is the branch's working set *)
-           match branch_working r b with
-           | Some w => match assoc t (d_schema w) with
-                       | Some cols => ans_eqb a (ARows cols (rows_of t (d_data w)))
-                       | None => is_error a
-                       end
-           | None => is_error a
-           end
-         | _ => match a with ARows _ _ | AHist _ _ => want_commit r v t a | _ => true end   (* refusing is fine; rows must be the right ones *)
-         end
-g    if revdb_denotes r v then want_commit r v t a
-    else match (norm_base r (fst v), snd v) with
-         | (BBranch b, []) =>                         (* dirty branch: `db/branch` is the branch's working set *)
-           match branch_working r b with
-           | Some w => match assoc t (d_schema w) with
-                       | Some cols => ans_eqb a (ARows cols (rows_of t (d_data w)))
-                       | None => is_error a
-                       end
-           | None => is_error a
-           end
-         | _ => match a with ARows _ _ | AHist _ _ => want_commit r v t a | _ => true end   (* refusing is fine; rows must be the right ones *)
-         end
-     if revdb_denotes r v then want_commit r v t a
-    else match (norm_base r (fst v), snd v) with
-         | (BBranch b, []) =>                         (* dirty branch: `db/branch` is the branch's working set *)
-           match branch_working r b with
-           | Some w => match assoc t (d_schema w) with
-                       | Some cols => ans_eqb a (ARows cols (rows_of t (d_data w)))
-                       | None => is_error a
-                       end
-           | None => is_error a
-           end
-         | _ => match a with ARows _ _ | AHist _ _ => want_commit r v t a | _ => true end   (* refusing is fine; rows must be the right ones *)
-         end
-s    if revdb_denotes r v then want_commit r v t a
-    else match (norm_base r (fst v), snd v) with
-         | (BBranch b, []) =>                         (* dirty branch: `db/branch` is the branch's working set *)
-           match branch_working r b with
-           | Some w => match assoc t (d_schema w) with
-                       | Some cols => ans_eqb a (ARows cols (rows_of t (d_data w)))
-                       | None => is_error a
-                       end
-           | None => is_error a
-           end
-         | _ => match a with ARows _ _ | AHist _ _ => want_commit r v t a | _ => true end   (* refusing is fine; rows must be the right ones *)
-         end
-e    if revdb_denotes r v then want_commit r v t a
-    else match (norm_base r (fst v), snd v) with
-         | (BBranch b, []) =>                         (* dirty branch: `db/branch` is the branch's working set *)
-           match branch_working r b with
-           | Some w => match assoc t (d_schema w) with
-                       | Some cols => ans_eqb a (ARows cols (rows_of t (d_data w)))
-                       | None => is_error a
-                       end
-           | None => is_error a
-           end
-         | _ => match a with ARows _ _ | AHist _ _ => want_commit r v t a | _ => true end   (* refusing is fine; rows must be the right ones *)
-         end
-t    if revdb_denotes r v then want_commit r v t a
-    else match (norm_base r (fst v), snd v) with
-         | (BBranch b, []) =>                         (* dirty branch: `db/branch` is the branch's working set *)
-           match branch_working r b with
-           | Some w => match assoc t (d_schema w) with
-                       | Some cols => ans_eqb a (ARows cols (rows_of t (d_data w)))
-                       | None => is_error a
-                       end
-           | None => is_error a
-           end
-         | _ => match a with ARows _ _ | AHist _ _ => want_commit r v t a | _ => true end   (* refusing is fine; rows must be the right ones *)
-         end
-,    if revdb_denotes r v then want_commit r v t a
-    else match (norm_base r (fst v), snd v) with
-         | (BBranch b, []) =>                         (* dirty branch: `db/branch` is the branch's working set *)
-           match branch_working r b with
-           | Some w => match assoc t (d_schema w) with
-                       | Some cols => ans_eqb a (ARows cols (rows_of t (d_data w)))
-                       | None => is_error a
-                       end
-           | None => is_error a
-           end
-         | _ => match a with ARows _ _ | AHist _ _ => want_commit r v t a | _ => true end   (* refusing is fine; rows must be the right ones *)
-         end
-     if revdb_denotes r v then want_commit r v t a
-    else match (norm_base r (fst v), snd v) with
-         | (BBranch b, []) =>                         (* dirty branch: `db/branch` is the branch's working set *)
-           match branch_working r b with
-           | Some w => match assoc t (d_schema w) with
-                       | Some cols => ans_eqb a (ARows cols (rows_of t (d_data w)))
-                       | None => is_error a
-                       end
-           | None => is_error a
-           end
-         | _ => match a with ARows _ _ | AHist _ _ => want_commit r v t a | _ => true end   (* refusing is fine; rows must be the right ones *)
-         end
-n    if revdb_denotes r v then want_commit r v t a
-    else match (norm_base r (fst v), snd v) with
-         | (BBranch b, []) =>                         (* dirty branch: `db/branch` is the branch's working set *)
-           match branch_working r b with
-           | Some w => match assoc t (d_schema w) with
-                       | Some cols => ans_eqb a (ARows cols (rows_of t (d_data w)))
-                       | None => is_error a
-                       end
-           | None => is_error a
-           end
-         | _ => match a with ARows _ _ | AHist _ _ => want_commit r v t a | _ => true end   (* refusing is fine; rows must be the right ones *)
-         end
-o    if revdb_denotes r v then want_commit r v t a
-    else match (norm_base r (fst v), snd v) with
-         | (BBranch b, []) =>                         (* dirty branch: `db/branch` is the branch's working set *)
-           match branch_working r b with
-           | Some w => match assoc t (d_schema w) with
-                       | Some cols => ans_eqb a (ARows cols (rows_of t (d_data w)))
-                       | None => is_error a
-                       end
-           | None => is_error a
-           end
-         | _ => match a with ARows _ _ | AHist _ _ => want_commit r v t a | _ => true end   (* refusing is fine; rows must be the right ones *)
-         end
-     if revdb_denotes r v then want_commit r v t a
-    else match (norm_base r (fst v), snd v) with
-         | (BBranch b, []) =>                         (* dirty branch: `db/branch` is the branch's working set *)
-           match branch_working r b with
-           | Some w => match assoc t (d_schema w) with
-                       | Some cols => ans_eqb a (ARows cols (rows_of t (d_data w)))
-                       | None => is_error a
-                       end
-           | None => is_error a
-           end
-         | _ => match a with ARows _ _ | AHist _ _ => want_commit r v t a | _ => true end   (* refusing is fine; rows must be the right ones *)
-         end
-c    if revdb_denotes r v then want_commit r v t a
-    else match (norm_base r (fst v), snd v) with
-         | (BBranch b, []) =>                         (* dirty branch: `db/branch` is the branch's working set *)
-           match branch_working r b with
-           | Some w => match assoc t (d_schema w) with
-                       | Some cols => ans_eqb a (ARows cols (rows_of t (d_data w)))
-                       | None => is_error a
-                       end
-           | None => is_error a
-           end
-         | _ => match a with ARows _ _ | AHist _ _ => want_commit r v t a | _ => true end   (* refusing is fine; rows must be the right ones *)
-         end
-o    if revdb_denotes r v then want_commit r v t a
-    else match (norm_base r (fst v), snd v) with
-         | (BBranch b, []) =>                         (* dirty branch: `db/branch` is the branch's working set *)
-           match branch_working r b with
-           | Some w => match assoc t (d_schema w) with
-                       | Some cols => ans_eqb a (ARows cols (rows_of t (d_data w)))
-                       | None => is_error a
-                       end
-           | None => is_error a
-           end
-         | _ => match a with ARows _ _ | AHist _ _ => want_commit r v t a | _ => true end   (* refusing is fine; rows must be the right ones *)
-         end
-m    if revdb_denotes r v then want_commit r v t a
-    else match (norm_base r (fst v), snd v) with
-         | (BBranch b, []) =>                         (* dirty branch: `db/branch` is the branch's working set *)
-           match branch_working r b with
-           | Some w => match assoc t (d_schema w) with
-                       | Some cols => ans_eqb a (ARows cols (rows_of t (d_data w)))
-                       | None => is_error a
-                       end
-           | None => is_error a
-           end
-         | _ => match a with ARows _ _ | AHist _ _ => want_commit r v t a | _ => true end   (* refusing is fine; rows must be the right ones *)
-         end
-m    if revdb_denotes r v then want_commit r v t a
-    else match (norm_base r (fst v), snd v) with
-         | (BBranch b, []) =>                         (* dirty branch: `db/branch` is the branch's working set *)
-           match branch_working r b with
-           | Some w => match assoc t (d_schema w) with
-                       | Some cols => ans_eqb a (ARows cols (rows_of t (d_data w)))
-                       | None => is_error a
-                       end
-           | None => is_error a
-           end
-         | _ => match a with ARows _ _ | AHist _ _ => want_commit r v t a | _ => true end   (* refusing is fine; rows must be the right ones *)
-         end
-i    if revdb_denotes r v then want_commit r v t a
-    else match (norm_base r (fst v), snd v) with
-         | (BBranch b, []) =>                         (* dirty branch: `db/branch` is the branch's working set *)
-           match branch_working r b with
-           | Some w => match assoc t (d_schema w) with
-                       | Some cols => ans_eqb a (ARows cols (rows_of t (d_data w)))
-                       | None => is_error a
-                       end
-           | None => is_error a
-           end
-         | _ => match a with ARows _ _ | AHist _ _ => want_commit r v t a | _ => true end   (* refusing is fine; rows must be the right ones *)
-         end
-t    if revdb_denotes r v then want_commit r v t a
-    else match (norm_base r (fst v), snd v) with
-         | (BBranch b, []) =>                         (* dirty branch: `db/branch` is the branch's working set *)
-           match branch_working r b with
-           | Some w => match assoc t (d_schema w) with
-                       | Some cols => ans_eqb a (ARows cols (rows_of t (d_data w)))
-                       | None => is_error a
-                       end
-           | None => is_error a
-           end
-         | _ => match a with ARows _ _ | AHist _ _ => want_commit r v t a | _ => true end   (* refusing is fine; rows must be the right ones *)
-         end
-     if revdb_denotes r v then want_commit r v t a
-    else match (norm_base r (fst v), snd v) with
-         | (BBranch b, []) =>                         (* dirty branch: `db/branch` is the branch's working set *)
-           match branch_working r b with
-           | Some w => match assoc t (d_schema w) with
-                       | Some cols => ans_eqb a (ARows cols (rows_of t (d_data w)))
-                       | None => is_error a
-                       end
-           | None => is_error a
-           end
-         | _ => match a with ARows _ _ | AHist _ _ => want_commit r v t a | _ => true end   (* refusing is fine; rows must be the right ones *)
-         end
-n    if revdb_denotes r v then want_commit r v t a
-    else match (norm_base r (fst v), snd v) with
-         | (BBranch b, []) =>                         (* dirty branch: `db/branch` is the branch's working set *)
-           match branch_working r b with
-           | Some w => match assoc t (d_schema w) with
-                       | Some cols => ans_eqb a (ARows cols (rows_of t (d_data w)))
-                       | None => is_error a
-                       end
-           | None => is_error a
-           end
-         | _ => match a with ARows _ _ | AHist _ _ => want_commit r v t a | _ => true end   (* refusing is fine; rows must be the right ones *)
-         end
-a    if revdb_denotes r v then want_commit r v t a
-    else match (norm_base r (fst v), snd v) with
-         | (BBranch b, []) =>                         (* dirty branch: `db/branch` is the branch's working set *)
-           match branch_working r b with
-           | Some w => match assoc t (d_schema w) with
-                       | Some cols => ans_eqb a (ARows cols (rows_of t (d_data w)))
-                       | None => is_error a
-                       end
-           | None => is_error a
-           end
-         | _ => match a with ARows _ _ | AHist _ _ => want_commit r v t a | _ => true end   (* refusing is fine; rows must be the right ones *)
-         end
-m    if revdb_denotes r v then want_commit r v t a
-    else match (norm_base r (fst v), snd v) with
-         | (BBranch b, []) =>                         (* dirty branch: `db/branch` is the branch's working set *)
-           match branch_working r b with
-           | Some w => match assoc t (d_schema w) with
-                       | Some cols => ans_eqb a (ARows cols (rows_of t (d_data w)))
-                       | None => is_error a
-                       end
-           | None => is_error a
-           end
-         | _ => match a with ARows _ _ | AHist _ _ => want_commit r v t a | _ => true end   (* refusing is fine; rows must be the right ones *)
-         end
-e    if revdb_denotes r v then want_commit r v t a
-    else match (norm_base r (fst v), snd v) with
-         | (BBranch b, []) =>                         (* dirty branch: `db/branch` is the branch's working set *)
-           match branch_working r b with
-           | Some w => match assoc t (d_schema w) with
-                       | Some cols => ans_eqb a (ARows cols (rows_of t (d_data w)))
-                       | None => is_error a
-                       end
-           | None => is_error a
-           end
-         | _ => match a with ARows _ _ | AHist _ _ => want_commit r v t a | _ => true end   (* refusing is fine; rows must be the right ones *)
-         end
-d    if revdb_denotes r v then want_commit r v t a
-    else match (norm_base r (fst v), snd v) with
-         | (BBranch b, []) =>                         (* dirty branch: `db/branch` is the branch's working set *)
-           match branch_working r b with
-           | Some w => match assoc t (d_schema w) with
-                       | Some cols => ans_eqb a (ARows cols (rows_of t (d_data w)))
-                       | None => is_error a
-                       end
-           | None => is_error a
-           end
-         | _ => match a with ARows _ _ | AHist _ _ => want_commit r v t a | _ => true end   (* refusing is fine; rows must be the right ones *)
-         end
-     if revdb_denotes r v then want_commit r v t a
-    else match (norm_base r (fst v), snd v) with
-         | (BBranch b, []) =>                         (* dirty branch: `db/branch` is the branch's working set *)
-           match branch_working r b with
-           | Some w => match assoc t (d_schema w) with
-                       | Some cols => ans_eqb a (ARows cols (rows_of t (d_data w)))
-                       | None => is_error a
-                       end
-           | None => is_error a
-           end
-         | _ => match a with ARows _ _ | AHist _ _ => want_commit r v t a | _ => true end   (* refusing is fine; rows must be the right ones *)
-         end
-*    if revdb_denotes r v then want_commit r v t a
-    else match (norm_base r (fst v), snd v) with
-         | (BBranch b, []) =>                         (* dirty branch: `db/branch` is the branch's working set *)
-           match branch_working r b with
-           | Some w => match assoc t (d_schema w) with
-                       | Some cols => ans_eqb a (ARows cols (rows_of t (d_data w)))
-                       | None => is_error a
-                       end
-           | None => is_error a
-           end
-         | _ => match a with ARows _ _ | AHist _ _ => want_commit r v t a | _ => true end   (* refusing is fine; rows must be the right ones *)
-         end
-)    if revdb_denotes r v then want_commit r v t a
-    else match (norm_base r (fst v), snd v) with
-         | (BBranch b, []) =>                         (* dirty branch: `db/branch` is the branch's working set *)
-           match branch_working r b with
-           | Some w => match assoc t (d_schema w) with
-                       | Some cols => ans_eqb a (ARows cols (rows_of t (d_data w)))
-                       | None => is_error a
-                       end
-           | None => is_error a
-           end
-         | _ => match a with ARows _ _ | AHist _ _ => want_commit r v t a | _ => true end   (* refusing is fine; rows must be the right ones *)
-         end
-
-    if revdb_denotes r v then want_commit r v t a
-    else match (norm_base r (fst v), snd v) with
-         | (BBranch b, []) =>                         (* dirty branch: `db/branch` is the branch's working set *)
-           match branch_working r b with
-           | Some w => match assoc t (d_schema w) with
-                       | Some cols => ans_eqb a (ARows cols (rows_of t (d_data w)))
-                       | None => is_error a
-                       end
-           | None => is_error a
-           end
-         | _ => match a with ARows _ _ | AHist _ _ => want_commit r v t a | _ => true end   (* refusing is fine; rows must be the right ones *)
-         end
-     if revdb_denotes r v then want_commit r v t a
-    else match (norm_base r (fst v), snd v) with
-         | (BBranch b, []) =>                         (* dirty branch: `db/branch` is the branch's working set *)
-           match branch_working r b with
-           | Some w => match assoc t (d_schema w) with
-                       | Some cols => ans_eqb a (ARows cols (rows_of t (d_data w)))
-                       | None => is_error a
-                       end
-           | None => is_error a
-           end
-         | _ => match a with ARows _ _ | AHist _ _ => want_commit r v t a | _ => true end   (* refusing is fine; rows must be the right ones *)
-         end
-     if revdb_denotes r v then want_commit r v t a
-    else match (norm_base r (fst v), snd v) with
-         | (BBranch b, []) =>                         (* dirty branch: `db/branch` is the branch's working set *)
-           match branch_working r b with
-           | Some w => match assoc t (d_schema w) with
-                       | Some cols => ans_eqb a (ARows cols (rows_of t (d_data w)))
-                       | None => is_error a
-                       end
-           | None => is_error a
-           end
-         | _ => match a with ARows _ _ | AHist _ _ => want_commit r v t a | _ => true end   (* refusing is fine; rows must be the right ones *)
-         end
-     if revdb_denotes r v then want_commit r v t a
-    else match (norm_base r (fst v), snd v) with
-         | (BBranch b, []) =>                         (* dirty branch: `db/branch` is the branch's working set *)
-           match branch_working r b with
-           | Some w => match assoc t (d_schema w) with
-                       | Some cols => ans_eqb a (ARows cols (rows_of t (d_data w)))
-                       | None => is_error a
-                       end
-           | None => is_error a
-           end
-         | _ => match a with ARows _ _ | AHist _ _ => want_commit r v t a | _ => true end   (* refusing is fine; rows must be the right ones *)
-         end
-     if revdb_denotes r v then want_commit r v t a
-    else match (norm_base r (fst v), snd v) with
-         | (BBranch b, []) =>                         (* dirty branch: `db/branch` is the branch's working set *)
-           match branch_working r b with
-           | Some w => match assoc t (d_schema w) with
-                       | Some cols => ans_eqb a (ARows cols (rows_of t (d_data w)))
-                       | None => is_error a
-                       end
-           | None => is_error a
-           end
-         | _ => match a with ARows _ _ | AHist _ _ => want_commit r v t a | _ => true end   (* refusing is fine; rows must be the right ones *)
-         end
-     if revdb_denotes r v then want_commit r v t a
-    else match (norm_base r (fst v), snd v) with
-         | (BBranch b, []) =>                         (* dirty branch: `db/branch` is the branch's working set *)
-           match branch_working r b with
-           | Some w => match assoc t (d_schema w) with
-                       | Some cols => ans_eqb a (ARows cols (rows_of t (d_data w)))
-                       | None => is_error a
-                       end
-           | None => is_error a
-           end
-         | _ => match a with ARows _ _ | AHist _ _ => want_commit r v t a | _ => true end   (* refusing is fine; rows must be the right ones *)
-         end
-     if revdb_denotes r v then want_commit r v t a
-    else match (norm_base r (fst v), snd v) with
-         | (BBranch b, []) =>                         (* dirty branch: `db/branch` is the branch's working set *)
-           match branch_working r b with
-           | Some w => match assoc t (d_schema w) with
-                       | Some cols => ans_eqb a (ARows cols (rows_of t (d_data w)))
-                       | None => is_error a
-                       end
-           | None => is_error a
-           end
-         | _ => match a with ARows _ _ | AHist _ _ => want_commit r v t a | _ => true end   (* refusing is fine; rows must be the right ones *)
-         end
-     if revdb_denotes r v then want_commit r v t a
-    else match (norm_base r (fst v), snd v) with
-         | (BBranch b, []) =>                         (* dirty branch: `db/branch` is the branch's working set *)
-           match branch_working r b with
-           | Some w => match assoc t (d_schema w) with
-                       | Some cols => ans_eqb a (ARows cols (rows_of t (d_data w)))
-                       | None => is_error a
-                       end
-           | None => is_error a
-           end
-         | _ => match a with ARows _ _ | AHist _ _ => want_commit r v t a | _ => true end   (* refusing is fine; rows must be the right ones *)
-         end
-     if revdb_denotes r v then want_commit r v t a
-    else match (norm_base r (fst v), snd v) with
-         | (BBranch b, []) =>                         (* dirty branch: `db/branch` is the branch's working set *)
-           match branch_working r b with
-           | Some w => match assoc t (d_schema w) with
-                       | Some cols => ans_eqb a (ARows cols (rows_of t (d_data w)))
-                       | None => is_error a
-                       end
-           | None => is_error a
-           end
-         | _ => match a with ARows _ _ | AHist _ _ => want_commit r v t a | _ => true end   (* refusing is fine; rows must be the right ones *)
-         end
-     if revdb_denotes r v then want_commit r v t a
-    else match (norm_base r (fst v), snd v) with
-         | (BBranch b, []) =>                         (* dirty branch: `db/branch` is the branch's working set *)
-           match branch_working r b with
-           | Some w => match assoc t (d_schema w) with
-                       | Some cols => ans_eqb a (ARows cols (rows_of t (d_data w)))
-                       | None => is_error a
-                       end
-           | None => is_error a
-           end
-         | _ => match a with ARows _ _ | AHist _ _ => want_commit r v t a | _ => true end   (* refusing is fine; rows must be the right ones *)
-         end
-|    if revdb_denotes r v then want_commit r v t a
-    else match (norm_base r (fst v), snd v) with
-         | (BBranch b, []) =>                         (* dirty branch: `db/branch` is the branch's working set *)
-           match branch_working r b with
-           | Some w => match assoc t (d_schema w) with
-                       | Some cols => ans_eqb a (ARows cols (rows_of t (d_data w)))
-                       | None => is_error a
-                       end
-           | None => is_error a
-           end
-         | _ => match a with ARows _ _ | AHist _ _ => want_commit r v t a | _ => true end   (* refusing is fine; rows must be the right ones *)
-         end
-     if revdb_denotes r v then want_commit r v t a
-    else match (norm_base r (fst v), snd v) with
-         | (BBranch b, []) =>                         (* dirty branch: `db/branch` is the branch's working set *)
-           match branch_working r b with
-           | Some w => match assoc t (d_schema w) with
-                       | Some cols => ans_eqb a (ARows cols (rows_of t (d_data w)))
-                       | None => is_error a
-                       end
-           | None => is_error a
-           end
-         | _ => match a with ARows _ _ | AHist _ _ => want_commit r v t a | _ => true end   (* refusing is fine; rows must be the right ones *)
-         end
-_    if revdb_denotes r v then want_commit r v t a
-    else match (norm_base r (fst v), snd v) with
-         | (BBranch b, []) =>                         (* dirty branch: `db/branch` is the branch's working set *)
-           match branch_working r b with
-           | Some w => match assoc t (d_schema w) with
-                       | Some cols => ans_eqb a (ARows cols (rows_of t (d_data w)))
-                       | None => is_error a
-                       end
-           | None => is_error a
-           end
-         | _ => match a with ARows _ _ | AHist _ _ => want_commit r v t a | _ => true end   (* refusing is fine; rows must be the right ones *)
-         end
-     if revdb_denotes r v then want_commit r v t a
-    else match (norm_base r (fst v), snd v) with
-         | (BBranch b, []) =>                         (* dirty branch: `db/branch` is the branch's working set *)
-           match branch_working r b with
-           | Some w => match assoc t (d_schema w) with
-                       | Some cols => ans_eqb a (ARows cols (rows_of t (d_data w)))
-                       | None => is_error a
-                       end
-           | None => is_error a
-           end
-         | _ => match a with ARows _ _ | AHist _ _ => want_commit r v t a | _ => true end   (* refusing is fine; rows must be the right ones *)
-         end
-=    if revdb_denotes r v then want_commit r v t a
-    else match (norm_base r (fst v), snd v) with
-         | (BBranch b, []) =>                         (* dirty branch: `db/branch` is the branch's working set *)
-           match branch_working r b with
-           | Some w => match assoc t (d_schema w) with
-                       | Some cols => ans_eqb a (ARows cols (rows_of t (d_data w)))
-                       | None => is_error a
-                       end
-           | None => is_error a
-           end
-         | _ => match a with ARows _ _ | AHist _ _ => want_commit r v t a | _ => true end   (* refusing is fine; rows must be the right ones *)
-         end
->    if revdb_denotes r v then want_commit r v t a
-    else match (norm_base r (fst v), snd v) with
-         | (BBranch b, []) =>                         (* dirty branch: `db/branch` is the branch's working set *)
-           match branch_working r b with
-           | Some w => match assoc t (d_schema w) with
-                       | Some cols => ans_eqb a (ARows cols (rows_of t (d_data w)))
-                       | None => is_error a
-                       end
-           | None => is_error a
-           end
-         | _ => match a with ARows _ _ | AHist _ _ => want_commit r v t a | _ => true end   (* refusing is fine; rows must be the right ones *)
-         end
-     if revdb_denotes r v then want_commit r v t a
-    else match (norm_base r (fst v), snd v) with
-         | (BBranch b, []) =>                         (* dirty branch: `db/branch` is the branch's working set *)
-           match branch_working r b with
-           | Some w => match assoc t (d_schema w) with
-                       | Some cols => ans_eqb a (ARows cols (rows_of t (d_data w)))
-                       | None => is_error a
-                       end
-           | None => is_error a
-           end
-         | _ => match a with ARows _ _ | AHist _ _ => want_commit r v t a | _ => true end   (* refusing is fine; rows must be the right ones *)
-         end
-m    if revdb_denotes r v then want_commit r v t a
-    else match (norm_base r (fst v), snd v) with
-         | (BBranch b, []) =>                         (* dirty branch: `db/branch` is the branch's working set *)
-           match branch_working r b with
-           | Some w => match assoc t (d_schema w) with
-                       | Some cols => ans_eqb a (ARows cols (rows_of t (d_data w)))
-                       | None => is_error a
-                       end
-           | None => is_error a
-           end
-         | _ => match a with ARows _ _ | AHist _ _ => want_commit r v t a | _ => true end   (* refusing is fine; rows must be the right ones *)
-         end
-a    if revdb_denotes r v then want_commit r v t a
-    else match (norm_base r (fst v), snd v) with
-         | (BBranch b, []) =>                         (* dirty branch: `db/branch` is the branch's working set *)
-           match branch_working r b with
-           | Some w => match assoc t (d_schema w) with
-                       | Some cols => ans_eqb a (ARows cols (rows_of t (d_data w)))
-                       | None => is_error a
-                       end
-           | None => is_error a
-           end
-         | _ => match a with ARows _ _ | AHist _ _ => want_commit r v t a | _ => true end   (* refusing is fine; rows must be the right ones *)
-         end
-t    if revdb_denotes r v then want_commit r v t a
-    else match (norm_base r (fst v), snd v) with
-         | (BBranch b, []) =>                         (* dirty branch: `db/branch` is the branch's working set *)
-           match branch_working r b with
-           | Some w => match assoc t (d_schema w) with
-                       | Some cols => ans_eqb a (ARows cols (rows_of t (d_data w)))
-                       | None => is_error a
-                       end
-           | None => is_error a
-           end
-         | _ => match a with ARows _ _ | AHist _ _ => want_commit r v t a | _ => true end   (* refusing is fine; rows must be the right ones *)
-         end
-c    if revdb_denotes r v then want_commit r v t a
-    else match (norm_base r (fst v), snd v) with
-         | (BBranch b, []) =>                         (* dirty branch: `db/branch` is the branch's working set *)
-           match branch_working r b with
-           | Some w => match assoc t (d_schema w) with
-                       | Some cols => ans_eqb a (ARows cols (rows_of t (d_data w)))
-                       | None => is_error a
-                       end
-           | None => is_error a
-           end
-         | _ => match a with ARows _ _ | AHist _ _ => want_commit r v t a | _ => true end   (* refusing is fine; rows must be the right ones *)
-         end
-h    if revdb_denotes r v then want_commit r v t a
-    else match (norm_base r (fst v), snd v) with
-         | (BBranch b, []) =>                         (* dirty branch: `db/branch` is the branch's working set *)
-           match branch_working r b with
-           | Some w => match assoc t (d_schema w) with
-                       | Some cols => ans_eqb a (ARows cols (rows_of t (d_data w)))
-                       | None => is_error a
-                       end
-           | None => is_error a
-           end
-         | _ => match a with ARows _ _ | AHist _ _ => want_commit r v t a | _ => true end   (* refusing is fine; rows must be the right ones *)
-         end
-     if revdb_denotes r v then want_commit r v t a
-    else match (norm_base r (fst v), snd v) with
-         | (BBranch b, []) =>                         (* dirty branch: `db/branch` is the branch's working set *)
-           match branch_working r b with
-           | Some w => match assoc t (d_schema w) with
-                       | Some cols => ans_eqb a (ARows cols (rows_of t (d_data w)))
-                       | None => is_error a
-                       end
-           | None => is_error a
-           end
-         | _ => match a with ARows _ _ | AHist _ _ => want_commit r v t a | _ => true end   (* refusing is fine; rows must be the right ones *)
-         end
-a    if revdb_denotes r v then want_commit r v t a
-    else match (norm_base r (fst v), snd v) with
-         | (BBranch b, []) =>                         (* dirty branch: `db/branch` is the branch's working set *)
-           match branch_working r b with
-           | Some w => match assoc t (d_schema w) with
-                       | Some cols => ans_eqb a (ARows cols (rows_of t (d_data w)))
-                       | None => is_error a
-                       end
-           | None => is_error a
-           end
-         | _ => match a with ARows _ _ | AHist _ _ => want_commit r v t a | _ => true end   (* refusing is fine; rows must be the right ones *)
-         end
-     if revdb_denotes r v then want_commit r v t a
-    else match (norm_base r (fst v), snd v) with
-         | (BBranch b, []) =>                         (* dirty branch: `db/branch` is the branch's working set *)
-           match branch_working r b with
-           | Some w => match assoc t (d_schema w) with
-                       | Some cols => ans_eqb a (ARows cols (rows_of t (d_data w)))
-                       | None => is_error a
-                       end
-           | None => is_error a
-           end
-         | _ => match a with ARows _ _ | AHist _ _ => want_commit r v t a | _ => true end   (* refusing is fine; rows must be the right ones *)
-         end
-w    if revdb_denotes r v then want_commit r v t a
-    else match (norm_base r (fst v), snd v) with
-         | (BBranch b, []) =>                         (* dirty branch: `db/branch` is the branch's working set *)
-           match branch_working r b with
-           | Some w => match assoc t (d_schema w) with
-                       | Some cols => ans_eqb a (ARows cols (rows_of t (d_data w)))
-                       | None => is_error a
-                       end
-           | None => is_error a
-           end
-         | _ => match a with ARows _ _ | AHist _ _ => want_commit r v t a | _ => true end   (* refusing is fine; rows must be the right ones *)
-         end
-i    if revdb_denotes r v then want_commit r v t a
-    else match (norm_base r (fst v), snd v) with
-         | (BBranch b, []) =>                         (* dirty branch: `db/branch` is the branch's working set *)
-           match branch_working r b with
-           | Some w => match assoc t (d_schema w) with
-                       | Some cols => ans_eqb a (ARows cols (rows_of t (d_data w)))
-                       | None => is_error a
-                       end
-           | None => is_error a
-           end
-         | _ => match a with ARows _ _ | AHist _ _ => want_commit r v t a | _ => true end   (* refusing is fine; rows must be the right ones *)
-         end
-t    if revdb_denotes r v then want_commit r v t a
-    else match (norm_base r (fst v), snd v) with
-         | (BBranch b, []) =>                         (* dirty branch: `db/branch` is the branch's working set *)
-           match branch_working r b with
-           | Some w => match assoc t (d_schema w) with
-                       | Some cols => ans_eqb a (ARows cols (rows_of t (d_data w)))
-                       | None => is_error a
-                       end
-           | None => is_error a
-           end
-         | _ => match a with ARows _ _ | AHist _ _ => want_commit r v t a | _ => true end   (* refusing is fine; rows must be the right ones *)
-         end
-h    if revdb_denotes r v then want_commit r v t a
-    else match (norm_base r (fst v), snd v) with
-         | (BBranch b, []) =>                         (* dirty branch: `db/branch` is the branch's working set *)
-           match branch_working r b with
-           | Some w => match assoc t (d_schema w) with
-                       | Some cols => ans_eqb a (ARows cols (rows_of t (d_data w)))
-                       | None => is_error a
-                       end
-           | None => is_error a
-           end
-         | _ => match a with ARows _ _ | AHist _ _ => want_commit r v t a | _ => true end   (* refusing is fine; rows must be the right ones *)
-         end
-     if revdb_denotes r v then want_commit r v t a
-    else match (norm_base r (fst v), snd v) with
-         | (BBranch b, []) =>                         (* dirty branch: `db/branch` is the branch's working set *)
-           match branch_working r b with
-           | Some w => match assoc t (d_schema w) with
-                       | Some cols => ans_eqb a (ARows cols (rows_of t (d_data w)))
-                       | None => is_error a
-                       end
-           | None => is_error a
-           end
-         | _ => match a with ARows _ _ | AHist _ _ => want_commit r v t a | _ => true end   (* refusing is fine; rows must be the right ones *)
-         end
-A    if revdb_denotes r v then want_commit r v t a
-    else match (norm_base r (fst v), snd v) with
-         | (BBranch b, []) =>                         (* dirty branch: `db/branch` is the branch's working set *)
-           match branch_working r b with
-           | Some w => match assoc t (d_schema w) with
-                       | Some cols => ans_eqb a (ARows cols (rows_of t (d_data w)))
-                       | None => is_error a
-                       end
-           | None => is_error a
-           end
-         | _ => match a with ARows _ _ | AHist _ _ => want_commit r v t a | _ => true end   (* refusing is fine; rows must be the right ones *)
-         end
-R    if revdb_denotes r v then want_commit r v t a
-    else match (norm_base r (fst v), snd v) with
-         | (BBranch b, []) =>                         (* dirty branch: `db/branch` is the branch's working set *)
-           match branch_working r b with
-           | Some w => match assoc t (d_schema w) with
-                       | Some cols => ans_eqb a (ARows cols (rows_of t (d_data w)))
-                       | None => is_error a
-                       end
-           | None => is_error a
-           end
-         | _ => match a with ARows _ _ | AHist _ _ => want_commit r v t a | _ => true end   (* refusing is fine; rows must be the right ones *)
-         end
-o    if revdb_denotes r v then want_commit r v t a
-    else match (norm_base r (fst v), snd v) with
-         | (BBranch b, []) =>                         (* dirty branch: `db/branch` is the branch's working set *)
-           match branch_working r b with
-           | Some w => match assoc t (d_schema w) with
-                       | Some cols => ans_eqb a (ARows cols (rows_of t (d_data w)))
-                       | None => is_error a
-                       end
-           | None => is_error a
-           end
-         | _ => match a with ARows _ _ | AHist _ _ => want_commit r v t a | _ => true end   (* refusing is fine; rows must be the right ones *)
-         end
-w    if revdb_denotes r v then want_commit r v t a
-    else match (norm_base r (fst v), snd v) with
-         | (BBranch b, []) =>                         (* dirty branch: `db/branch` is the branch's working set *)
-           match branch_working r b with
-           | Some w => match assoc t (d_schema w) with
-                       | Some cols => ans_eqb a (ARows cols (rows_of t (d_data w)))
-                       | None => is_error a
-                       end
-           | None => is_error a
-           end
-         | _ => match a with ARows _ _ | AHist _ _ => want_commit r v t a | _ => true end   (* refusing is fine; rows must be the right ones *)
-         end
-s    if revdb_denotes r v then want_commit r v t a
-    else match (norm_base r (fst v), snd v) with
-         | (BBranch b, []) =>                         (* dirty branch: `db/branch` is the branch's working set *)
-           match branch_working r b with
-           | Some w => match assoc t (d_schema w) with
-                       | Some cols => ans_eqb a (ARows cols (rows_of t (d_data w)))
-                       | None => is_error a
-                       end
-           | None => is_error a
-           end
-         | _ => match a with ARows _ _ | AHist _ _ => want_commit r v t a | _ => true end   (* refusing is fine; rows must be the right ones *)
-         end
-     if revdb_denotes r v then want_commit r v t a
-    else match (norm_base r (fst v), snd v) with
-         | (BBranch b, []) =>                         (* dirty branch: `db/branch` is the branch's working set *)
-           match branch_working r b with
-           | Some w => match assoc t (d_schema w) with
-                       | Some cols => ans_eqb a (ARows cols (rows_of t (d_data w)))
-                       | None => is_error a
-                       end
-           | None => is_error a
-           end
-         | _ => match a with ARows _ _ | AHist _ _ => want_commit r v t a | _ => true end   (* refusing is fine; rows must be the right ones *)
-         end
-_    if revdb_denotes r v then want_commit r v t a
-    else match (norm_base r (fst v), snd v) with
-         | (BBranch b, []) =>                         (* dirty branch: `db/branch` is the branch's working set *)
-           match branch_working r b with
-           | Some w => match assoc t (d_schema w) with
-                       | Some cols => ans_eqb a (ARows cols (rows_of t (d_data w)))
-                       | None => is_error a
-                       end
-           | None => is_error a
-           end
-         | _ => match a with ARows _ _ | AHist _ _ => want_commit r v t a | _ => true end   (* refusing is fine; rows must be the right ones *)
-         end
-     if revdb_denotes r v then want_commit r v t a
-    else match (norm_base r (fst v), snd v) with
-         | (BBranch b, []) =>                         (* dirty branch: `db/branch` is the branch's working set *)
-           match branch_working r b with
-           | Some w => match assoc t (d_schema w) with
-                       | Some cols => ans_eqb a (ARows cols (rows_of t (d_data w)))
-                       | None => is_error a
-                       end
-           | None => is_error a
-           end
-         | _ => match a with ARows _ _ | AHist _ _ => want_commit r v t a | _ => true end   (* refusing is fine; rows must be the right ones *)
-         end
-_    if revdb_denotes r v then want_commit r v t a
-    else match (norm_base r (fst v), snd v) with
-         | (BBranch b, []) =>                         (* dirty branch: `db/branch` is the branch's working set *)
-           match branch_working r b with
-           | Some w => match assoc t (d_schema w) with
-                       | Some cols => ans_eqb a (ARows cols (rows_of t (d_data w)))
-                       | None => is_error a
-                       end
-           | None => is_error a
-           end
-         | _ => match a with ARows _ _ | AHist _ _ => want_commit r v t a | _ => true end   (* refusing is fine; rows must be the right ones *)
-         end
-     if revdb_denotes r v then want_commit r v t a
-    else match (norm_base r (fst v), snd v) with
-         | (BBranch b, []) =>                         (* dirty branch: `db/branch` is the branch's working set *)
-           match branch_working r b with
-           | Some w => match assoc t (d_schema w) with
-                       | Some cols => ans_eqb a (ARows cols (rows_of t (d_data w)))
-                       | None => is_error a
-                       end
-           | None => is_error a
-           end
-         | _ => match a with ARows _ _ | AHist _ _ => want_commit r v t a | _ => true end   (* refusing is fine; rows must be the right ones *)
-         end
-|    if revdb_denotes r v then want_commit r v t a
-    else match (norm_base r (fst v), snd v) with
-         | (BBranch b, []) =>                         (* dirty branch: `db/branch` is the branch's working set *)
-           match branch_working r b with
-           | Some w => match assoc t (d_schema w) with
-                       | Some cols => ans_eqb a (ARows cols (rows_of t (d_data w)))
-                       | None => is_error a
-                       end
-           | None => is_error a
-           end
-         | _ => match a with ARows _ _ | AHist _ _ => want_commit r v t a | _ => true end   (* refusing is fine; rows must be the right ones *)
-         end
-     if revdb_denotes r v then want_commit r v t a
-    else match (norm_base r (fst v), snd v) with
-         | (BBranch b, []) =>                         (* dirty branch: `db/branch` is the branch's working set *)
-           match branch_working r b with
-           | Some w => match assoc t (d_schema w) with
-                       | Some cols => ans_eqb a (ARows cols (rows_of t (d_data w)))
-                       | None => is_error a
-                       end
-           | None => is_error a
-           end
-         | _ => match a with ARows _ _ | AHist _ _ => want_commit r v t a | _ => true end   (* refusing is fine; rows must be the right ones *)
-         end
-A    if revdb_denotes r v then want_commit r v t a
-    else match (norm_base r (fst v), snd v) with
-         | (BBranch b, []) =>                         (* dirty branch: `db/branch` is the branch's working set *)
-           match branch_working r b with
-           | Some w => match assoc t (d_schema w) with
-                       | Some cols => ans_eqb a (ARows cols (rows_of t (d_data w)))
-                       | None => is_error a
-                       end
-           | None => is_error a
-           end
-         | _ => match a with ARows _ _ | AHist _ _ => want_commit r v t a | _ => true end   (* refusing is fine; rows must be the right ones *)
-         end
-H    if revdb_denotes r v then want_commit r v t a
-    else match (norm_base r (fst v), snd v) with
-         | (BBranch b, []) =>                         (* dirty branch: `db/branch` is the branch's working set *)
-           match branch_working r b with
-           | Some w => match assoc t (d_schema w) with
-                       | Some cols => ans_eqb a (ARows cols (rows_of t (d_data w)))
-                       | None => is_error a
-                       end
-           | None => is_error a
-           end
-         | _ => match a with ARows _ _ | AHist _ _ => want_commit r v t a | _ => true end   (* refusing is fine; rows must be the right ones *)
-         end
-i    if revdb_denotes r v then want_commit r v t a
-    else match (norm_base r (fst v), snd v) with
-         | (BBranch b, []) =>                         (* dirty branch: `db/branch` is the branch's working set *)
-           match branch_working r b with
-           | Some w => match assoc t (d_schema w) with
-                       | Some cols => ans_eqb a (ARows cols (rows_of t (d_data w)))
-                       | None => is_error a
-                       end
-           | None => is_error a
-           end
-         | _ => match a with ARows _ _ | AHist _ _ => want_commit r v t a | _ => true end   (* refusing is fine; rows must be the right ones *)
-         end
-s    if revdb_denotes r v then want_commit r v t a
-    else match (norm_base r (fst v), snd v) with
-         | (BBranch b, []) =>                         (* dirty branch: `db/branch` is the branch's working set *)
-           match branch_working r b with
-           | Some w => match assoc t (d_schema w) with
-                       | Some cols => ans_eqb a (ARows cols (rows_of t (d_data w)))
-                       | None => is_error a
-                       end
-           | None => is_error a
-           end
-         | _ => match a with ARows _ _ | AHist _ _ => want_commit r v t a | _ => true end   (* refusing is fine; rows must be the right ones *)
-         end
-t    if revdb_denotes r v then want_commit r v t a
-    else match (norm_base r (fst v), snd v) with
-         | (BBranch b, []) =>                         (* dirty branch: `db/branch` is the branch's working set *)
-           match branch_working r b with
-           | Some w => match assoc t (d_schema w) with
-                       | Some cols => ans_eqb a (ARows cols (rows_of t (d_data w)))
-                       | None => is_error a
-                       end
-           | None => is_error a
-           end
-         | _ => match a with ARows _ _ | AHist _ _ => want_commit r v t a | _ => true end   (* refusing is fine; rows must be the right ones *)
-         end
-     if revdb_denotes r v then want_commit r v t a
-    else match (norm_base r (fst v), snd v) with
-         | (BBranch b, []) =>                         (* dirty branch: `db/branch` is the branch's working set *)
-           match branch_working r b with
-           | Some w => match assoc t (d_schema w) with
-                       | Some cols => ans_eqb a (ARows cols (rows_of t (d_data w)))
-                       | None => is_error a
-                       end
-           | None => is_error a
-           end
-         | _ => match a with ARows _ _ | AHist _ _ => want_commit r v t a | _ => true end   (* refusing is fine; rows must be the right ones *)
-         end
-_    if revdb_denotes r v then want_commit r v t a
-    else match (norm_base r (fst v), snd v) with
-         | (BBranch b, []) =>                         (* dirty branch: `db/branch` is the branch's working set *)
-           match branch_working r b with
-           | Some w => match assoc t (d_schema w) with
-                       | Some cols => ans_eqb a (ARows cols (rows_of t (d_data w)))
-                       | None => is_error a
-                       end
-           | None => is_error a
-           end
-         | _ => match a with ARows _ _ | AHist _ _ => want_commit r v t a | _ => true end   (* refusing is fine; rows must be the right ones *)
-         end
-     if revdb_denotes r v then want_commit r v t a
-    else match (norm_base r (fst v), snd v) with
-         | (BBranch b, []) =>                         (* dirty branch: `db/branch` is the branch's working set *)
-           match branch_working r b with
-           | Some w => match assoc t (d_schema w) with
-                       | Some cols => ans_eqb a (ARows cols (rows_of t (d_data w)))
-                       | None => is_error a
-                       end
-           | None => is_error a
-           end
-         | _ => match a with ARows _ _ | AHist _ _ => want_commit r v t a | _ => true end   (* refusing is fine; rows must be the right ones *)
-         end
-_    if revdb_denotes r v then want_commit r v t a
-    else match (norm_base r (fst v), snd v) with
-         | (BBranch b, []) =>                         (* dirty branch: `db/branch` is the branch's working set *)
-           match branch_working r b with
-           | Some w => match assoc t (d_schema w) with
-                       | Some cols => ans_eqb a (ARows cols (rows_of t (d_data w)))
-                       | None => is_error a
-                       end
-           | None => is_error a
-           end
-         | _ => match a with ARows _ _ | AHist _ _ => want_commit r v t a | _ => true end   (* refusing is fine; rows must be the right ones *)
-         end
-     if revdb_denotes r v then want_commit r v t a
-    else match (norm_base r (fst v), snd v) with
-         | (BBranch b, []) =>                         (* dirty branch: `db/branch` is the branch's working set *)
-           match branch_working r b with
-           | Some w => match assoc t (d_schema w) with
-                       | Some cols => ans_eqb a (ARows cols (rows_of t (d_data w)))
-                       | None => is_error a
-                       end
-           | None => is_error a
-           end
-         | _ => match a with ARows _ _ | AHist _ _ => want_commit r v t a | _ => true end   (* refusing is fine; rows must be the right ones *)
-         end
-=    if revdb_denotes r v then want_commit r v t a
-    else match (norm_base r (fst v), snd v) with
-         | (BBranch b, []) =>                         (* dirty branch: `db/branch` is the branch's working set *)
-           match branch_working r b with
-           | Some w => match assoc t (d_schema w) with
-                       | Some cols => ans_eqb a (ARows cols (rows_of t (d_data w)))
-                       | None => is_error a
-                       end
-           | None => is_error a
-           end
-         | _ => match a with ARows _ _ | AHist _ _ => want_commit r v t a | _ => true end   (* refusing is fine; rows must be the right ones *)
-         end
->    if revdb_denotes r v then want_commit r v t a
-    else match (norm_base r (fst v), snd v) with
-         | (BBranch b, []) =>                         (* dirty branch: `db/branch` is the branch's working set *)
-           match branch_working r b with
-           | Some w => match assoc t (d_schema w) with
-                       | Some cols => ans_eqb a (ARows cols (rows_of t (d_data w)))
-                       | None => is_error a
-                       end
-           | None => is_error a
-           end
-         | _ => match a with ARows _ _ | AHist _ _ => want_commit r v t a | _ => true end   (* refusing is fine; rows must be the right ones *)
-         end
-     if revdb_denotes r v then want_commit r v t a
-    else match (norm_base r (fst v), snd v) with
-         | (BBranch b, []) =>                         (* dirty branch: `db/branch` is the branch's working set *)
-           match branch_working r b with
-           | Some w => match assoc t (d_schema w) with
-                       | Some cols => ans_eqb a (ARows cols (rows_of t (d_data w)))
-                       | None => is_error a
-                       end
-           | None => is_error a
-           end
-         | _ => match a with ARows _ _ | AHist _ _ => want_commit r v t a | _ => true end   (* refusing is fine; rows must be the right ones *)
-         end
-w    if revdb_denotes r v then want_commit r v t a
-    else match (norm_base r (fst v), snd v) with
-         | (BBranch b, []) =>                         (* dirty branch: `db/branch` is the branch's working set *)
-           match branch_working r b with
-           | Some w => match assoc t (d_schema w) with
-                       | Some cols => ans_eqb a (ARows cols (rows_of t (d_data w)))
-                       | None => is_error a
-                       end
-           | None => is_error a
-           end
-         | _ => match a with ARows _ _ | AHist _ _ => want_commit r v t a | _ => true end   (* refusing is fine; rows must be the right ones *)
-         end
-a    if revdb_denotes r v then want_commit r v t a
-    else match (norm_base r (fst v), snd v) with
-         | (BBranch b, []) =>                         (* dirty branch: `db/branch` is the branch's working set *)
-           match branch_working r b with
-           | Some w => match assoc t (d_schema w) with
-                       | Some cols => ans_eqb a (ARows cols (rows_of t (d_data w)))
-                       | None => is_error a
-                       end
-           | None => is_error a
-           end
-         | _ => match a with ARows _ _ | AHist _ _ => want_commit r v t a | _ => true end   (* refusing is fine; rows must be the right ones *)
-         end
-n    if revdb_denotes r v then want_commit r v t a
-    else match (norm_base r (fst v), snd v) with
-         | (BBranch b, []) =>                         (* dirty branch: `db/branch` is the branch's working set *)
-           match branch_working r b with
-           | Some w => match assoc t (d_schema w) with
-                       | Some cols => ans_eqb a (ARows cols (rows_of t (d_data w)))
-                       | None => is_error a
-                       end
-           | None => is_error a
-           end
-         | _ => match a with ARows _ _ | AHist _ _ => want_commit r v t a | _ => true end   (* refusing is fine; rows must be the right ones *)
-         end
-t    if revdb_denotes r v then want_commit r v t a
-    else match (norm_base r (fst v), snd v) with
-         | (BBranch b, []) =>                         (* dirty branch: `db/branch` is the branch's working set *)
-           match branch_working r b with
-           | Some w => match assoc t (d_schema w) with
-                       | Some cols => ans_eqb a (ARows cols (rows_of t (d_data w)))
-                       | None => is_error a
-                       end
-           | None => is_error a
-           end
-         | _ => match a with ARows _ _ | AHist _ _ => want_commit r v t a | _ => true end   (* refusing is fine; rows must be the right ones *)
-         end
-_    if revdb_denotes r v then want_commit r v t a
-    else match (norm_base r (fst v), snd v) with
-         | (BBranch b, []) =>                         (* dirty branch: `db/branch` is the branch's working set *)
-           match branch_working r b with
-           | Some w => match assoc t (d_schema w) with
-                       | Some cols => ans_eqb a (ARows cols (rows_of t (d_data w)))
-                       | None => is_error a
-                       end
-           | None => is_error a
-           end
-         | _ => match a with ARows _ _ | AHist _ _ => want_commit r v t a | _ => true end   (* refusing is fine; rows must be the right ones *)
-         end
-c    if revdb_denotes r v then want_commit r v t a
-    else match (norm_base r (fst v), snd v) with
-         | (BBranch b, []) =>                         (* dirty branch: `db/branch` is the branch's working set *)
-           match branch_working r b with
-           | Some w => match assoc t (d_schema w) with
-                       | Some cols => ans_eqb a (ARows cols (rows_of t (d_data w)))
-                       | None => is_error a
-                       end
-           | None => is_error a
-           end
-         | _ => match a with ARows _ _ | AHist _ _ => want_commit r v t a | _ => true end   (* refusing is fine; rows must be the right ones *)
-         end
-o    if revdb_denotes r v then want_commit r v t a
-    else match (norm_base r (fst v), snd v) with
-         | (BBranch b, []) =>                         (* dirty branch: `db/branch` is the branch's working set *)
-           match branch_working r b with
-           | Some w => match assoc t (d_schema w) with
-                       | Some cols => ans_eqb a (ARows cols (rows_of t (d_data w)))
-                       | None => is_error a
-                       end
-           | None => is_error a
-           end
-         | _ => match a with ARows _ _ | AHist _ _ => want_commit r v t a | _ => true end   (* refusing is fine; rows must be the right ones *)
-         end
-m    if revdb_denotes r v then want_commit r v t a
-    else match (norm_base r (fst v), snd v) with
-         | (BBranch b, []) =>                         (* dirty branch: `db/branch` is the branch's working set *)
-           match branch_working r b with
-           | Some w => match assoc t (d_schema w) with
-                       | Some cols => ans_eqb a (ARows cols (rows_of t (d_data w)))
-                       | None => is_error a
-                       end
-           | None => is_error a
-           end
-         | _ => match a with ARows _ _ | AHist _ _ => want_commit r v t a | _ => true end   (* refusing is fine; rows must be the right ones *)
-         end
-m    if revdb_denotes r v then want_commit r v t a
-    else match (norm_base r (fst v), snd v) with
-         | (BBranch b, []) =>                         (* dirty branch: `db/branch` is the branch's working set *)
-           match branch_working r b with
-           | Some w => match assoc t (d_schema w) with
-                       | Some cols => ans_eqb a (ARows cols (rows_of t (d_data w)))
-                       | None => is_error a
-                       end
-           | None => is_error a
-           end
-         | _ => match a with ARows _ _ | AHist _ _ => want_commit r v t a | _ => true end   (* refusing is fine; rows must be the right ones *)
-         end
-i    if revdb_denotes r v then want_commit r v t a
-    else match (norm_base r (fst v), snd v) with
-         | (BBranch b, []) =>                         (* dirty branch: `db/branch` is the branch's working set *)
-           match branch_working r b with
-           | Some w => match assoc t (d_schema w) with
-                       | Some cols => ans_eqb a (ARows cols (rows_of t (d_data w)))
-                       | None => is_error a
-                       end
-           | None => is_error a
-           end
-         | _ => match a with ARows _ _ | AHist _ _ => want_commit r v t a | _ => true end   (* refusing is fine; rows must be the right ones *)
-         end
-t    if revdb_denotes r v then want_commit r v t a
-    else match (norm_base r (fst v), snd v) with
-         | (BBranch b, []) =>                         (* dirty branch: `db/branch` is the branch's working set *)
-           match branch_working r b with
-           | Some w => match assoc t (d_schema w) with
-                       | Some cols => ans_eqb a (ARows cols (rows_of t (d_data w)))
-                       | None => is_error a
-                       end
-           | None => is_error a
-           end
-         | _ => match a with ARows _ _ | AHist _ _ => want_commit r v t a | _ => true end   (* refusing is fine; rows must be the right ones *)
-         end
-     if revdb_denotes r v then want_commit r v t a
-    else match (norm_base r (fst v), snd v) with
-         | (BBranch b, []) =>                         (* dirty branch: `db/branch` is the branch's working set *)
-           match branch_working r b with
-           | Some w => match assoc t (d_schema w) with
-                       | Some cols => ans_eqb a (ARows cols (rows_of t (d_data w)))
-                       | None => is_error a
-                       end
-           | None => is_error a
-           end
-         | _ => match a with ARows _ _ | AHist _ _ => want_commit r v t a | _ => true end   (* refusing is fine; rows must be the right ones *)
-         end
-r    if revdb_denotes r v then want_commit r v t a
-    else match (norm_base r (fst v), snd v) with
-         | (BBranch b, []) =>                         (* dirty branch: `db/branch` is the branch's working set *)
-           match branch_working r b with
-           | Some w => match assoc t (d_schema w) with
-                       | Some cols => ans_eqb a (ARows cols (rows_of t (d_data w)))
-                       | None => is_error a
-                       end
-           | None => is_error a
-           end
-         | _ => match a with ARows _ _ | AHist _ _ => want_commit r v t a | _ => true end   (* refusing is fine; rows must be the right ones *)
-         end
-     if revdb_denotes r v then want_commit r v t a
-    else match (norm_base r (fst v), snd v) with
-         | (BBranch b, []) =>                         (* dirty branch: `db/branch` is the branch's working set *)
-           match branch_working r b with
-           | Some w => match assoc t (d_schema w) with
-                       | Some cols => ans_eqb a (ARows cols (rows_of t (d_data w)))
-                       | None => is_error a
-                       end
-           | None => is_error a
-           end
-         | _ => match a with ARows _ _ | AHist _ _ => want_commit r v t a | _ => true end   (* refusing is fine; rows must be the right ones *)
-         end
-v    if revdb_denotes r v then want_commit r v t a
-    else match (norm_base r (fst v), snd v) with
-         | (BBranch b, []) =>                         (* dirty branch: `db/branch` is the branch's working set *)
-           match branch_working r b with
-           | Some w => match assoc t (d_schema w) with
-                       | Some cols => ans_eqb a (ARows cols (rows_of t (d_data w)))
-                       | None => is_error a
-                       end
-           | None => is_error a
-           end
-         | _ => match a with ARows _ _ | AHist _ _ => want_commit r v t a | _ => true end   (* refusing is fine; rows must be the right ones *)
-         end
-     if revdb_denotes r v then want_commit r v t a
-    else match (norm_base r (fst v), snd v) with
-         | (BBranch b, []) =>                         (* dirty branch: `db/branch` is the branch's working set *)
-           match branch_working r b with
-           | Some w => match assoc t (d_schema w) with
-                       | Some cols => ans_eqb a (ARows cols (rows_of t (d_data w)))
-                       | None => is_error a
-                       end
-           | None => is_error a
-           end
-         | _ => match a with ARows _ _ | AHist _ _ => want_commit r v t a | _ => true end   (* refusing is fine; rows must be the right ones *)
-         end
-t    if revdb_denotes r v then want_commit r v t a
-    else match (norm_base r (fst v), snd v) with
-         | (BBranch b, []) =>                         (* dirty branch: `db/branch` is the branch's working set *)
-           match branch_working r b with
-           | Some w => match assoc t (d_schema w) with
-                       | Some cols => ans_eqb a (ARows cols (rows_of t (d_data w)))
-                       | None => is_error a
-                       end
-           | None => is_error a
-           end
-         | _ => match a with ARows _ _ | AHist _ _ => want_commit r v t a | _ => true end   (* refusing is fine; rows must be the right ones *)
-         end
-     if revdb_denotes r v then want_commit r v t a
-    else match (norm_base r (fst v), snd v) with
-         | (BBranch b, []) =>                         (* dirty branch: `db/branch` is the branch's working set *)
-           match branch_working r b with
-           | Some w => match assoc t (d_schema w) with
-                       | Some cols => ans_eqb a (ARows cols (rows_of t (d_data w)))
-                       | None => is_error a
-                       end
-           | None => is_error a
-           end
-         | _ => match a with ARows _ _ | AHist _ _ => want_commit r v t a | _ => true end   (* refusing is fine; rows must be the right ones *)
-         end
-a    if revdb_denotes r v then want_commit r v t a
-    else match (norm_base r (fst v), snd v) with
-         | (BBranch b, []) =>                         (* dirty branch: `db/branch` is the branch's working set *)
-           match branch_working r b with
-           | Some w => match assoc t (d_schema w) with
-                       | Some cols => ans_eqb a (ARows cols (rows_of t (d_data w)))
-                       | None => is_error a
-                       end
-           | None => is_error a
-           end
-         | _ => match a with ARows _ _ | AHist _ _ => want_commit r v t a | _ => true end   (* refusing is fine; rows must be the right ones *)
-         end
-     if revdb_denotes r v then want_commit r v t a
-    else match (norm_base r (fst v), snd v) with
-         | (BBranch b, []) =>                         (* dirty branch: `db/branch` is the branch's working set *)
-           match branch_working r b with
-           | Some w => match assoc t (d_schema w) with
-                       | Some cols => ans_eqb a (ARows cols (rows_of t (d_data w)))
-                       | None => is_error a
-                       end
-           | None => is_error a
-           end
-         | _ => match a with ARows _ _ | AHist _ _ => want_commit r v t a | _ => true end   (* refusing is fine; rows must be the right ones *)
-         end
-|    if revdb_denotes r v then want_commit r v t a
-    else match (norm_base r (fst v), snd v) with
-         | (BBranch b, []) =>                         (* dirty branch: `db/branch` is the branch's working set *)
-           match branch_working r b with
-           | Some w => match assoc t (d_schema w) with
-                       | Some cols => ans_eqb a (ARows cols (rows_of t (d_data w)))
-                       | None => is_error a
-                       end
-           | None => is_error a
-           end
-         | _ => match a with ARows _ _ | AHist _ _ => want_commit r v t a | _ => true end   (* refusing is fine; rows must be the right ones *)
-         end
-     if revdb_denotes r v then want_commit r v t a
-    else match (norm_base r (fst v), snd v) with
-         | (BBranch b, []) =>                         (* dirty branch: `db/branch` is the branch's working set *)
-           match branch_working r b with
-           | Some w => match assoc t (d_schema w) with
-                       | Some cols => ans_eqb a (ARows cols (rows_of t (d_data w)))
-                       | None => is_error a
-                       end
-           | None => is_error a
-           end
-         | _ => match a with ARows _ _ | AHist _ _ => want_commit r v t a | _ => true end   (* refusing is fine; rows must be the right ones *)
-         end
-_    if revdb_denotes r v then want_commit r v t a
-    else match (norm_base r (fst v), snd v) with
-         | (BBranch b, []) =>                         (* dirty branch: `db/branch` is the branch's working set *)
-           match branch_working r b with
-           | Some w => match assoc t (d_schema w) with
-                       | Some cols => ans_eqb a (ARows cols (rows_of t (d_data w)))
-                       | None => is_error a
-                       end
-           | None => is_error a
-           end
-         | _ => match a with ARows _ _ | AHist _ _ => want_commit r v t a | _ => true end   (* refusing is fine; rows must be the right ones *)
-         end
-     if revdb_denotes r v then want_commit r v t a
-    else match (norm_base r (fst v), snd v) with
-         | (BBranch b, []) =>                         (* dirty branch: `db/branch` is the branch's working set *)
-           match branch_working r b with
-           | Some w => match assoc t (d_schema w) with
-                       | Some cols => ans_eqb a (ARows cols (rows_of t (d_data w)))
-                       | None => is_error a
-                       end
-           | None => is_error a
-           end
-         | _ => match a with ARows _ _ | AHist _ _ => want_commit r v t a | _ => true end   (* refusing is fine; rows must be the right ones *)
-         end
-=    if revdb_denotes r v then want_commit r v t a
-    else match (norm_base r (fst v), snd v) with
-         | (BBranch b, []) =>                         (* dirty branch: `db/branch` is the branch's working set *)
-           match branch_working r b with
-           | Some w => match assoc t (d_schema w) with
-                       | Some cols => ans_eqb a (ARows cols (rows_of t (d_data w)))
-                       | None => is_error a
-                       end
-           | None => is_error a
-           end
-         | _ => match a with ARows _ _ | AHist _ _ => want_commit r v t a | _ => true end   (* refusing is fine; rows must be the right ones *)
-         end
->    if revdb_denotes r v then want_commit r v t a
-    else match (norm_base r (fst v), snd v) with
-         | (BBranch b, []) =>                         (* dirty branch: `db/branch` is the branch's working set *)
-           match branch_working r b with
-           | Some w => match assoc t (d_schema w) with
-                       | Some cols => ans_eqb a (ARows cols (rows_of t (d_data w)))
-                       | None => is_error a
-                       end
-           | None => is_error a
-           end
-         | _ => match a with ARows _ _ | AHist _ _ => want_commit r v t a | _ => true end   (* refusing is fine; rows must be the right ones *)
-         end
-     if revdb_denotes r v then want_commit r v t a
-    else match (norm_base r (fst v), snd v) with
-         | (BBranch b, []) =>                         (* dirty branch: `db/branch` is the branch's working set *)
-           match branch_working r b with
-           | Some w => match assoc t (d_schema w) with
-                       | Some cols => ans_eqb a (ARows cols (rows_of t (d_data w)))
-                       | None => is_error a
-                       end
-           | None => is_error a
-           end
-         | _ => match a with ARows _ _ | AHist _ _ => want_commit r v t a | _ => true end   (* refusing is fine; rows must be the right ones *)
-         end
-t    if revdb_denotes r v then want_commit r v t a
-    else match (norm_base r (fst v), snd v) with
-         | (BBranch b, []) =>                         (* dirty branch: `db/branch` is the branch's working set *)
-           match branch_working r b with
-           | Some w => match assoc t (d_schema w) with
-                       | Some cols => ans_eqb a (ARows cols (rows_of t (d_data w)))
-                       | None => is_error a
-                       end
-           | None => is_error a
-           end
-         | _ => match a with ARows _ _ | AHist _ _ => want_commit r v t a | _ => true end   (* refusing is fine; rows must be the right ones *)
-         end
-r    if revdb_denotes r v then want_commit r v t a
-    else match (norm_base r (fst v), snd v) with
-         | (BBranch b, []) =>                         (* dirty branch: `db/branch` is the branch's working set *)
-           match branch_working r b with
-           | Some w => match assoc t (d_schema w) with
-                       | Some cols => ans_eqb a (ARows cols (rows_of t (d_data w)))
-                       | None => is_error a
-                       end
-           | None => is_error a
-           end
-         | _ => match a with ARows _ _ | AHist _ _ => want_commit r v t a | _ => true end   (* refusing is fine; rows must be the right ones *)
-         end
-u    if revdb_denotes r v then want_commit r v t a
-    else match (norm_base r (fst v), snd v) with
-         | (BBranch b, []) =>                         (* dirty branch: `db/branch` is the branch's working set *)
-           match branch_working r b with
-           | Some w => match assoc t (d_schema w) with
-                       | Some cols => ans_eqb a (ARows cols (rows_of t (d_data w)))
-                       | None => is_error a
-                       end
-           | None => is_error a
-           end
-         | _ => match a with ARows _ _ | AHist _ _ => want_commit r v t a | _ => true end   (* refusing is fine; rows must be the right ones *)
-         end
-e    if revdb_denotes r v then want_commit r v t a
-    else match (norm_base r (fst v), snd v) with
-         | (BBranch b, []) =>                         (* dirty branch: `db/branch` is the branch's working set *)
-           match branch_working r b with
-           | Some w => match assoc t (d_schema w) with
-                       | Some cols => ans_eqb a (ARows cols (rows_of t (d_data w)))
-                       | None => is_error a
-                       end
-           | None => is_error a
-           end
-         | _ => match a with ARows _ _ | AHist _ _ => want_commit r v t a | _ => true end   (* refusing is fine; rows must be the right ones *)
-         end
-     if revdb_denotes r v then want_commit r v t a
-    else match (norm_base r (fst v), snd v) with
-         | (BBranch b, []) =>                         (* dirty branch: `db/branch` is the branch's working set *)
-           match branch_working r b with
-           | Some w => match assoc t (d_schema w) with
-                       | Some cols => ans_eqb a (ARows cols (rows_of t (d_data w)))
-                       | None => is_error a
-                       end
-           | None => is_error a
-           end
-         | _ => match a with ARows _ _ | AHist _ _ => want_commit r v t a | _ => true end   (* refusing is fine; rows must be the right ones *)
-         end
-e    if revdb_denotes r v then want_commit r v t a
-    else match (norm_base r (fst v), snd v) with
-         | (BBranch b, []) =>                         (* dirty branch: `db/branch` is the branch's working set *)
-           match branch_working r b with
-           | Some w => match assoc t (d_schema w) with
-                       | Some cols => ans_eqb a (ARows cols (rows_of t (d_data w)))
-                       | None => is_error a
-                       end
-           | None => is_error a
-           end
-         | _ => match a with ARows _ _ | AHist _ _ => want_commit r v t a | _ => true end   (* refusing is fine; rows must be the right ones *)
-         end
-n    if revdb_denotes r v then want_commit r v t a
-    else match (norm_base r (fst v), snd v) with
-         | (BBranch b, []) =>                         (* dirty branch: `db/branch` is the branch's working set *)
-           match branch_working r b with
-           | Some w => match assoc t (d_schema w) with
-                       | Some cols => ans_eqb a (ARows cols (rows_of t (d_data w)))
-                       | None => is_error a
-                       end
-           | None => is_error a
-           end
-         | _ => match a with ARows _ _ | AHist _ _ => want_commit r v t a | _ => true end   (* refusing is fine; rows must be the right ones *)
-         end
-d    if revdb_denotes r v then want_commit r v t a
-    else match (norm_base r (fst v), snd v) with
-         | (BBranch b, []) =>                         (* dirty branch: `db/branch` is the branch's working set *)
-           match branch_working r b with
-           | Some w => match assoc t (d_schema w) with
-                       | Some cols => ans_eqb a (ARows cols (rows_of t (d_data w)))
-                       | None => is_error a
-                       end
-           | None => is_error a
-           end
-         | _ => match a with ARows _ _ | AHist _ _ => want_commit r v t a | _ => true end   (* refusing is fine; rows must be the right ones *)
-         end
-     if revdb_denotes r v then want_commit r v t a
-    else match (norm_base r (fst v), snd v) with
-         | (BBranch b, []) =>                         (* dirty branch: `db/branch` is the branch's working set *)
-           match branch_working r b with
-           | Some w => match assoc t (d_schema w) with
-                       | Some cols => ans_eqb a (ARows cols (rows_of t (d_data w)))
-                       | None => is_error a
-                       end
-           | None => is_error a
-           end
-         | _ => match a with ARows _ _ | AHist _ _ => want_commit r v t a | _ => true end   (* refusing is fine; rows must be the right ones *)
-         end
-     if revdb_denotes r v then want_commit r v t a
-    else match (norm_base r (fst v), snd v) with
-         | (BBranch b, []) =>                         (* dirty branch: `db/branch` is the branch's working set *)
-           match branch_working r b with
-           | Some w => match assoc t (d_schema w) with
-                       | Some cols => ans_eqb a (ARows cols (rows_of t (d_data w)))
-                       | None => is_error a
-                       end
-           | None => is_error a
-           end
-         | _ => match a with ARows _ _ | AHist _ _ => want_commit r v t a | _ => true end   (* refusing is fine; rows must be the right ones *)
-         end
-     if revdb_denotes r v then want_commit r v t a
-    else match (norm_base r (fst v), snd v) with
-         | (BBranch b, []) =>                         (* dirty branch: `db/branch` is the branch's working set *)
-           match branch_working r b with
-           | Some w => match assoc t (d_schema w) with
-                       | Some cols => ans_eqb a (ARows cols (rows_of t (d_data w)))
-                       | None => is_error a
-                       end
-           | None => is_error a
-           end
-         | _ => match a with ARows _ _ | AHist _ _ => want_commit r v t a | _ => true end   (* refusing is fine; rows must be the right ones *)
-         end
-(    if revdb_denotes r v then want_commit r v t a
-    else match (norm_base r (fst v), snd v) with
-         | (BBranch b, []) =>                         (* dirty branch: `db/branch` is the branch's working set *)
-           match branch_working r b with
-           | Some w => match assoc t (d_schema w) with
-                       | Some cols => ans_eqb a (ARows cols (rows_of t (d_data w)))
-                       | None => is_error a
-                       end
-           | None => is_error a
-           end
-         | _ => match a with ARows _ _ | AHist _ _ => want_commit r v t a | _ => true end   (* refusing is fine; rows must be the right ones *)
-         end
-*    if revdb_denotes r v then want_commit r v t a
-    else match (norm_base r (fst v), snd v) with
-         | (BBranch b, []) =>                         (* dirty branch: `db/branch` is the branch's working set *)
-           match branch_working r b with
-           | Some w => match assoc t (d_schema w) with
-                       | Some cols => ans_eqb a (ARows cols (rows_of t (d_data w)))
-                       | None => is_error a
-                       end
-           | None => is_error a
-           end
-         | _ => match a with ARows _ _ | AHist _ _ => want_commit r v t a | _ => true end   (* refusing is fine; rows must be the right ones *)
-         end
-     if revdb_denotes r v then want_commit r v t a
-    else match (norm_base r (fst v), snd v) with
-         | (BBranch b, []) =>                         (* dirty branch: `db/branch` is the branch's working set *)
-           match branch_working r b with
-           | Some w => match assoc t (d_schema w) with
-                       | Some cols => ans_eqb a (ARows cols (rows_of t (d_data w)))
-                       | None => is_error a
-                       end
-           | None => is_error a
-           end
-         | _ => match a with ARows _ _ | AHist _ _ => want_commit r v t a | _ => true end   (* refusing is fine; rows must be the right ones *)
-         end
-r    if revdb_denotes r v then want_commit r v t a
-    else match (norm_base r (fst v), snd v) with
-         | (BBranch b, []) =>                         (* dirty branch: `db/branch` is the branch's working set *)
-           match branch_working r b with
-           | Some w => match assoc t (d_schema w) with
-                       | Some cols => ans_eqb a (ARows cols (rows_of t (d_data w)))
-                       | None => is_error a
-                       end
-           | None => is_error a
-           end
-         | _ => match a with ARows _ _ | AHist _ _ => want_commit r v t a | _ => true end   (* refusing is fine; rows must be the right ones *)
-         end
-e    if revdb_denotes r v then want_commit r v t a
-    else match (norm_base r (fst v), snd v) with
-         | (BBranch b, []) =>                         (* dirty branch: `db/branch` is the branch's working set *)
-           match branch_working r b with
-           | Some w => match assoc t (d_schema w) with
-                       | Some cols => ans_eqb a (ARows cols (rows_of t (d_data w)))
-                       | None => is_error a
-                       end
-           | None => is_error a
-           end
-         | _ => match a with ARows _ _ | AHist _ _ => want_commit r v t a | _ => true end   (* refusing is fine; rows must be the right ones *)
-         end
-f    if revdb_denotes r v then want_commit r v t a
-    else match (norm_base r (fst v), snd v) with
-         | (BBranch b, []) =>                         (* dirty branch: `db/branch` is the branch's working set *)
-           match branch_working r b with
-           | Some w => match assoc t (d_schema w) with
-                       | Some cols => ans_eqb a (ARows cols (rows_of t (d_data w)))
-                       | None => is_error a
-                       end
-           | None => is_error a
-           end
-         | _ => match a with ARows _ _ | AHist _ _ => want_commit r v t a | _ => true end   (* refusing is fine; rows must be the right ones *)
-         end
-u    if revdb_denotes r v then want_commit r v t a
-    else match (norm_base r (fst v), snd v) with
-         | (BBranch b, []) =>                         (* dirty branch: `db/branch` is the branch's working set *)
-           match branch_working r b with
-           | Some w => match assoc t (d_schema w) with
-                       | Some cols => ans_eqb a (ARows cols (rows_of t (d_data w)))
-                       | None => is_error a
-                       end
-           | None => is_error a
-           end
-         | _ => match a with ARows _ _ | AHist _ _ => want_commit r v t a | _ => true end   (* refusing is fine; rows must be the right ones *)
-         end
-s    if revdb_denotes r v then want_commit r v t a
-    else match (norm_base r (fst v), snd v) with
-         | (BBranch b, []) =>                         (* dirty branch: `db/branch` is the branch's working set *)
-           match branch_working r b with
-           | Some w => match assoc t (d_schema w) with
-                       | Some cols => ans_eqb a (ARows cols (rows_of t (d_data w)))
-                       | None => is_error a
-                       end
-           | None => is_error a
-           end
-         | _ => match a with ARows _ _ | AHist _ _ => want_commit r v t a | _ => true end   (* refusing is fine; rows must be the right ones *)
-         end
-i    if revdb_denotes r v then want_commit r v t a
-    else match (norm_base r (fst v), snd v) with
-         | (BBranch b, []) =>                         (* dirty branch: `db/branch` is the branch's working set *)
-           match branch_working r b with
-           | Some w => match assoc t (d_schema w) with
-                       | Some cols => ans_eqb a (ARows cols (rows_of t (d_data w)))
-                       | None => is_error a
-                       end
-           | None => is_error a
-           end
-         | _ => match a with ARows _ _ | AHist _ _ => want_commit r v t a | _ => true end   (* refusing is fine; rows must be the right ones *)
-         end
-n    if revdb_denotes r v then want_commit r v t a
-    else match (norm_base r (fst v), snd v) with
-         | (BBranch b, []) =>                         (* dirty branch: `db/branch` is the branch's working set *)
-           match branch_working r b with
-           | Some w => match assoc t (d_schema w) with
-                       | Some cols => ans_eqb a (ARows cols (rows_of t (d_data w)))
-                       | None => is_error a
-                       end
-           | None => is_error a
-           end
-         | _ => match a with ARows _ _ | AHist _ _ => want_commit r v t a | _ => true end   (* refusing is fine; rows must be the right ones *)
-         end
-g    if revdb_denotes r v then want_commit r v t a
-    else match (norm_base r (fst v), snd v) with
-         | (BBranch b, []) =>                         (* dirty branch: `db/branch` is the branch's working set *)
-           match branch_working r b with
-           | Some w => match assoc t (d_schema w) with
-                       | Some cols => ans_eqb a (ARows cols (rows_of t (d_data w)))
-                       | None => is_error a
-                       end
-           | None => is_error a
-           end
-         | _ => match a with ARows _ _ | AHist _ _ => want_commit r v t a | _ => true end   (* refusing is fine; rows must be the right ones *)
-         end
-     if revdb_denotes r v then want_commit r v t a
-    else match (norm_base r (fst v), snd v) with
-         | (BBranch b, []) =>                         (* dirty branch: `db/branch` is the branch's working set *)
-           match branch_working r b with
-           | Some w => match assoc t (d_schema w) with
-                       | Some cols => ans_eqb a (ARows cols (rows_of t (d_data w)))
-                       | None => is_error a
-                       end
-           | None => is_error a
-           end
-         | _ => match a with ARows _ _ | AHist _ _ => want_commit r v t a | _ => true end   (* refusing is fine; rows must be the right ones *)
-         end
-i    if revdb_denotes r v then want_commit r v t a
-    else match (norm_base r (fst v), snd v) with
-         | (BBranch b, []) =>                         (* dirty branch: `db/branch` is the branch's working set *)
-           match branch_working r b with
-           | Some w => match assoc t (d_schema w) with
-                       | Some cols => ans_eqb a (ARows cols (rows_of t (d_data w)))
-                       | None => is_error a
-                       end
-           | None => is_error a
-           end
-         | _ => match a with ARows _ _ | AHist _ _ => want_commit r v t a | _ => true end   (* refusing is fine; rows must be the right ones *)
-         end
-s    if revdb_denotes r v then want_commit r v t a
-    else match (norm_base r (fst v), snd v) with
-         | (BBranch b, []) =>                         (* dirty branch: `db/branch` is the branch's working set *)
-           match branch_working r b with
-           | Some w => match assoc t (d_schema w) with
-                       | Some cols => ans_eqb a (ARows cols (rows_of t (d_data w)))
-                       | None => is_error a
-                       end
-           | None => is_error a
-           end
-         | _ => match a with ARows _ _ | AHist _ _ => want_commit r v t a | _ => true end   (* refusing is fine; rows must be the right ones *)
-         end
-     if revdb_denotes r v then want_commit r v t a
-    else match (norm_base r (fst v), snd v) with
-         | (BBranch b, []) =>                         (* dirty branch: `db/branch` is the branch's working set *)
-           match branch_working r b with
-           | Some w => match assoc t (d_schema w) with
-                       | Some cols => ans_eqb a (ARows cols (rows_of t (d_data w)))
-                       | None => is_error a
-                       end
-           | None => is_error a
-           end
-         | _ => match a with ARows _ _ | AHist _ _ => want_commit r v t a | _ => true end   (* refusing is fine; rows must be the right ones *)
-         end
-f    if revdb_denotes r v then want_commit r v t a
-    else match (norm_base r (fst v), snd v) with
-         | (BBranch b, []) =>                         (* dirty branch: `db/branch` is the branch's working set *)
-           match branch_working r b with
-           | Some w => match assoc t (d_schema w) with
-                       | Some cols => ans_eqb a (ARows cols (rows_of t (d_data w)))
-                       | None => is_error a
-                       end
-           | None => is_error a
-           end
-         | _ => match a with ARows _ _ | AHist _ _ => want_commit r v t a | _ => true end   (* refusing is fine; rows must be the right ones *)
-         end
-i    if revdb_denotes r v then want_commit r v t a
-    else match (norm_base r (fst v), snd v) with
-         | (BBranch b, []) =>                         (* dirty branch: `db/branch` is the branch's working set *)
-           match branch_working r b with
-           | Some w => match assoc t (d_schema w) with
-                       | Some cols => ans_eqb a (ARows cols (rows_of t (d_data w)))
-                       | None => is_error a
-                       end
-           | None => is_error a
-           end
-         | _ => match a with ARows _ _ | AHist _ _ => want_commit r v t a | _ => true end   (* refusing is fine; rows must be the right ones *)
-         end
-n    if revdb_denotes r v then want_commit r v t a
-    else match (norm_base r (fst v), snd v) with
-         | (BBranch b, []) =>                         (* dirty branch: `db/branch` is the branch's working set *)
-           match branch_working r b with
-           | Some w => match assoc t (d_schema w) with
-                       | Some cols => ans_eqb a (ARows cols (rows_of t (d_data w)))
-                       | None => is_error a
-                       end
-           | None => is_error a
-           end
-         | _ => match a with ARows _ _ | AHist _ _ => want_commit r v t a | _ => true end   (* refusing is fine; rows must be the right ones *)
-         end
-e    if revdb_denotes r v then want_commit r v t a
-    else match (norm_base r (fst v), snd v) with
-         | (BBranch b, []) =>                         (* dirty branch: `db/branch` is the branch's working set *)
-           match branch_working r b with
-           | Some w => match assoc t (d_schema w) with
-                       | Some cols => ans_eqb a (ARows cols (rows_of t (d_data w)))
-                       | None => is_error a
-                       end
-           | None => is_error a
-           end
-         | _ => match a with ARows _ _ | AHist _ _ => want_commit r v t a | _ => true end   (* refusing is fine; rows must be the right ones *)
-         end
-;    if revdb_denotes r v then want_commit r v t a
-    else match (norm_base r (fst v), snd v) with
-         | (BBranch b, []) =>                         (* dirty branch: `db/branch` is the branch's working set *)
-           match branch_working r b with
-           | Some w => match assoc t (d_schema w) with
-                       | Some cols => ans_eqb a (ARows cols (rows_of t (d_data w)))
-                       | None => is_error a
-                       end
-           | None => is_error a
-           end
-         | _ => match a with ARows _ _ | AHist _ _ => want_commit r v t a | _ => true end   (* refusing is fine; rows must be the right ones *)
-         end
-     if revdb_denotes r v then want_commit r v t a
-    else match (norm_base r (fst v), snd v) with
-         | (BBranch b, []) =>                         (* dirty branch: `db/branch` is the branch's working set *)
-           match branch_working r b with
-           | Some w => match assoc t (d_schema w) with
-                       | Some cols => ans_eqb a (ARows cols (rows_of t (d_data w)))
-                       | None => is_error a
-                       end
-           | None => is_error a
-           end
-         | _ => match a with ARows _ _ | AHist _ _ => want_commit r v t a | _ => true end   (* refusing is fine; rows must be the right ones *)
-         end
-r    if revdb_denotes r v then want_commit r v t a
-    else match (norm_base r (fst v), snd v) with
-         | (BBranch b, []) =>                         (* dirty branch: `db/branch` is the branch's working set *)
-           match branch_working r b with
-           | Some w => match assoc t (d_schema w) with
-                       | Some cols => ans_eqb a (ARows cols (rows_of t (d_data w)))
-                       | None => is_error a
-                       end
-           | None => is_error a
-           end
-         | _ => match a with ARows _ _ | AHist _ _ => want_commit r v t a | _ => true end   (* refusing is fine; rows must be the right ones *)
-         end
-o    if revdb_denotes r v then want_commit r v t a
-    else match (norm_base r (fst v), snd v) with
-         | (BBranch b, []) =>                         (* dirty branch: `db/branch` is the branch's working set *)
-           match branch_working r b with
-           | Some w => match assoc t (d_schema w) with
-                       | Some cols => ans_eqb a (ARows cols (rows_of t (d_data w)))
-                       | None => is_error a
-                       end
-           | None => is_error a
-           end
-         | _ => match a with ARows _ _ | AHist _ _ => want_commit r v t a | _ => true end   (* refusing is fine; rows must be the right ones *)
-         end
-w    if revdb_denotes r v then want_commit r v t a
-    else match (norm_base r (fst v), snd v) with
-         | (BBranch b, []) =>                         (* dirty branch: `db/branch` is the branch's working set *)
-           match branch_working r b with
-           | Some w => match assoc t (d_schema w) with
-                       | Some cols => ans_eqb a (ARows cols (rows_of t (d_data w)))
-                       | None => is_error a
-                       end
-           | None => is_error a
-           end
-         | _ => match a with ARows _ _ | AHist _ _ => want_commit r v t a | _ => true end   (* refusing is fine; rows must be the right ones *)
-         end
-s    if revdb_denotes r v then want_commit r v t a
-    else match (norm_base r (fst v), snd v) with
-         | (BBranch b, []) =>                         (* dirty branch: `db/branch` is the branch's working set *)
-           match branch_working r b with
-           | Some w => match assoc t (d_schema w) with
-                       | Some cols => ans_eqb a (ARows cols (rows_of t (d_data w)))
-                       | None => is_error a
-                       end
-           | None => is_error a
-           end
-         | _ => match a with ARows _ _ | AHist _ _ => want_commit r v t a | _ => true end   (* refusing is fine; rows must be the right ones *)
-         end
-     if revdb_denotes r v then want_commit r v t a
-    else match (norm_base r (fst v), snd v) with
-         | (BBranch b, []) =>                         (* dirty branch: `db/branch` is the branch's working set *)
-           match branch_working r b with
-           | Some w => match assoc t (d_schema w) with
-                       | Some cols => ans_eqb a (ARows cols (rows_of t (d_data w)))
-                       | None => is_error a
-                       end
-           | None => is_error a
-           end
-         | _ => match a with ARows _ _ | AHist _ _ => want_commit r v t a | _ => true end   (* refusing is fine; rows must be the right ones *)
-         end
-m    if revdb_denotes r v then want_commit r v t a
-    else match (norm_base r (fst v), snd v) with
-         | (BBranch b, []) =>                         (* dirty branch: `db/branch` is the branch's working set *)
-           match branch_working r b with
-           | Some w => match assoc t (d_schema w) with
-                       | Some cols => ans_eqb a (ARows cols (rows_of t (d_data w)))
-                       | None => is_error a
-                       end
-           | None => is_error a
-           end
-         | _ => match a with ARows _ _ | AHist _ _ => want_commit r v t a | _ => true end   (* refusing is fine; rows must be the right ones *)
-         end
-u    if revdb_denotes r v then want_commit r v t a
-    else match (norm_base r (fst v), snd v) with
-         | (BBranch b, []) =>                         (* dirty branch: `db/branch` is the branch's working set *)
-           match branch_working r b with
-           | Some w => match assoc t (d_schema w) with
-                       | Some cols => ans_eqb a (ARows cols (rows_of t (d_data w)))
-                       | None => is_error a
-                       end
-           | None => is_error a
-           end
-         | _ => match a with ARows _ _ | AHist _ _ => want_commit r v t a | _ => true end   (* refusing is fine; rows must be the right ones *)
-         end
-s    if revdb_denotes r v then want_commit r v t a
-    else match (norm_base r (fst v), snd v) with
-         | (BBranch b, []) =>                         (* dirty branch: `db/branch` is the branch's working set *)
-           match branch_working r b with
-           | Some w => match assoc t (d_schema w) with
-                       | Some cols => ans_eqb a (ARows cols (rows_of t (d_data w)))
-                       | None => is_error a
-                       end
-           | None => is_error a
-           end
-         | _ => match a with ARows _ _ | AHist _ _ => want_commit r v t a | _ => true end   (* refusing is fine; rows must be the right ones *)
-         end
-t    if revdb_denotes r v then want_commit r v t a
-    else match (norm_base r (fst v), snd v) with
-         | (BBranch b, []) =>                         (* dirty branch: `db/branch` is the branch's working set *)
-           match branch_working r b with
-           | Some w => match assoc t (d_schema w) with
-                       | Some cols => ans_eqb a (ARows cols (rows_of t (d_data w)))
-                       | None => is_error a
-                       end
-           | None => is_error a
-           end
-         | _ => match a with ARows _ _ | AHist _ _ => want_commit r v t a | _ => true end   (* refusing is fine; rows must be the right ones *)
-         end
-     if revdb_denotes r v then want_commit r v t a
-    else match (norm_base r (fst v), snd v) with
-         | (BBranch b, []) =>                         (* dirty branch: `db/branch` is the branch's working set *)
-           match branch_working r b with
-           | Some w => match assoc t (d_schema w) with
-                       | Some cols => ans_eqb a (ARows cols (rows_of t (d_data w)))
-                       | None => is_error a
-                       end
-           | None => is_error a
-           end
-         | _ => match a with ARows _ _ | AHist _ _ => want_commit r v t a | _ => true end   (* refusing is fine; rows must be the right ones *)
-         end
-b    if revdb_denotes r v then want_commit r v t a
-    else match (norm_base r (fst v), snd v) with
-         | (BBranch b, []) =>                         (* dirty branch: `db/branch` is the branch's working set *)
-           match branch_working r b with
-           | Some w => match assoc t (d_schema w) with
-                       | Some cols => ans_eqb a (ARows cols (rows_of t (d_data w)))
-                       | None => is_error a
-                       end
-           | None => is_error a
-           end
-         | _ => match a with ARows _ _ | AHist _ _ => want_commit r v t a | _ => true end   (* refusing is fine; rows must be the right ones *)
-         end
-e    if revdb_denotes r v then want_commit r v t a
-    else match (norm_base r (fst v), snd v) with
-         | (BBranch b, []) =>                         (* dirty branch: `db/branch` is the branch's working set *)
-           match branch_working r b with
-           | Some w => match assoc t (d_schema w) with
-                       | Some cols => ans_eqb a (ARows cols (rows_of t (d_data w)))
-                       | None => is_error a
-                       end
-           | None => is_error a
-           end
-         | _ => match a with ARows _ _ | AHist _ _ => want_commit r v t a | _ => true end   (* refusing is fine; rows must be the right ones *)
-         end
-     if revdb_denotes r v then want_commit r v t a
-    else match (norm_base r (fst v), snd v) with
-         | (BBranch b, []) =>                         (* dirty branch: `db/branch` is the branch's working set *)
-           match branch_working r b with
-           | Some w => match assoc t (d_schema w) with
-                       | Some cols => ans_eqb a (ARows cols (rows_of t (d_data w)))
-                       | None => is_error a
-                       end
-           | None => is_error a
-           end
-         | _ => match a with ARows _ _ | AHist _ _ => want_commit r v t a | _ => true end   (* refusing is fine; rows must be the right ones *)
-         end
-t    if revdb_denotes r v then want_commit r v t a
-    else match (norm_base r (fst v), snd v) with
-         | (BBranch b, []) =>                         (* dirty branch: `db/branch` is the branch's working set *)
-           match branch_working r b with
-           | Some w => match assoc t (d_schema w) with
-                       | Some cols => ans_eqb a (ARows cols (rows_of t (d_data w)))
-                       | None => is_error a
-                       end
-           | None => is_error a
-           end
-         | _ => match a with ARows _ _ | AHist _ _ => want_commit r v t a | _ => true end   (* refusing is fine; rows must be the right ones *)
-         end
-h    if revdb_denotes r v then want_commit r v t a
-    else match (norm_base r (fst v), snd v) with
-         | (BBranch b, []) =>                         (* dirty branch: `db/branch` is the branch's working set *)
-           match branch_working r b with
-           | Some w => match assoc t (d_schema w) with
-                       | Some cols => ans_eqb a (ARows cols (rows_of t (d_data w)))
-                       | None => is_error a
-                       end
-           | None => is_error a
-           end
-         | _ => match a with ARows _ _ | AHist _ _ => want_commit r v t a | _ => true end   (* refusing is fine; rows must be the right ones *)
-         end
-e    if revdb_denotes r v then want_commit r v t a
-    else match (norm_base r (fst v), snd v) with
-         | (BBranch b, []) =>                         (* dirty branch: `db/branch` is the branch's working set *)
-           match branch_working r b with
-           | Some w => match assoc t (d_schema w) with
-                       | Some cols => ans_eqb a (ARows cols (rows_of t (d_data w)))
-                       | None => is_error a
-                       end
-           | None => is_error a
-           end
-         | _ => match a with ARows _ _ | AHist _ _ => want_commit r v t a | _ => true end   (* refusing is fine; rows must be the right ones *)
-         end
-     if revdb_denotes r v then want_commit r v t a
-    else match (norm_base r (fst v), snd v) with
-         | (BBranch b, []) =>                         (* dirty branch: `db/branch` is the branch's working set *)
-           match branch_working r b with
-           | Some w => match assoc t (d_schema w) with
-                       | Some cols => ans_eqb a (ARows cols (rows_of t (d_data w)))
-                       | None => is_error a
-                       end
-           | None => is_error a
-           end
-         | _ => match a with ARows _ _ | AHist _ _ => want_commit r v t a | _ => true end   (* refusing is fine; rows must be the right ones *)
-         end
-r    if revdb_denotes r v then want_commit r v t a
-    else match (norm_base r (fst v), snd v) with
-         | (BBranch b, []) =>                         (* dirty branch: `db/branch` is the branch's working set *)
-           match branch_working r b with
-           | Some w => match assoc t (d_schema w) with
-                       | Some cols => ans_eqb a (ARows cols (rows_of t (d_data w)))
-                       | None => is_error a
-                       end
-           | None => is_error a
-           end
-         | _ => match a with ARows _ _ | AHist _ _ => want_commit r v t a | _ => true end   (* refusing is fine; rows must be the right ones *)
-         end
-i    if revdb_denotes r v then want_commit r v t a
-    else match (norm_base r (fst v), snd v) with
-         | (BBranch b, []) =>                         (* dirty branch: `db/branch` is the branch's working set *)
-           match branch_working r b with
-           | Some w => match assoc t (d_schema w) with
-                       | Some cols => ans_eqb a (ARows cols (rows_of t (d_data w)))
-                       | None => is_error a
-                       end
-           | None => is_error a
-           end
-         | _ => match a with ARows _ _ | AHist _ _ => want_commit r v t a | _ => true end   (* refusing is fine; rows must be the right ones *)
-         end
-g    if revdb_denotes r v then want_commit r v t a
-    else match (norm_base r (fst v), snd v) with
-         | (BBranch b, []) =>                         (* dirty branch: `db/branch` is the branch's working set *)
-           match branch_working r b with
-           | Some w => match assoc t (d_schema w) with
-                       | Some cols => ans_eqb a (ARows cols (rows_of t (d_data w)))
-                       | None => is_error a
-                       end
-           | None => is_error a
-           end
-         | _ => match a with ARows _ _ | AHist _ _ => want_commit r v t a | _ => true end   (* refusing is fine; rows must be the right ones *)
-         end
-h    if revdb_denotes r v then want_commit r v t a
-    else match (norm_base r (fst v), snd v) with
-         | (BBranch b, []) =>                         (* dirty branch: `db/branch` is the branch's working set *)
-           match branch_working r b with
-           | Some w => match assoc t (d_schema w) with
-                       | Some cols => ans_eqb a (ARows cols (rows_of t (d_data w)))
-                       | None => is_error a
-                       end
-           | None => is_error a
-           end
-         | _ => match a with ARows _ _ | AHist _ _ => want_commit r v t a | _ => true end   (* refusing is fine; rows must be the right ones *)
-         end
-t    if revdb_denotes r v then want_commit r v t a
-    else match (norm_base r (fst v), snd v) with
-         | (BBranch b, []) =>                         (* dirty branch: `db/branch` is the branch's working set *)
-           match branch_working r b with
-           | Some w => match assoc t (d_schema w) with
-                       | Some cols => ans_eqb a (ARows cols (rows_of t (d_data w)))
-                       | None => is_error a
-                       end
-           | None => is_error a
-           end
-         | _ => match a with ARows _ _ | AHist _ _ => want_commit r v t a | _ => true end   (* refusing is fine; rows must be the right ones *)
-         end
-     if revdb_denotes r v then want_commit r v t a
-    else match (norm_base r (fst v), snd v) with
-         | (BBranch b, []) =>                         (* dirty branch: `db/branch` is the branch's working set *)
-           match branch_working r b with
-           | Some w => match assoc t (d_schema w) with
-                       | Some cols => ans_eqb a (ARows cols (rows_of t (d_data w)))
-                       | None => is_error a
-                       end
-           | None => is_error a
-           end
-         | _ => match a with ARows _ _ | AHist _ _ => want_commit r v t a | _ => true end   (* refusing is fine; rows must be the right ones *)
-         end
-o    if revdb_denotes r v then want_commit r v t a
-    else match (norm_base r (fst v), snd v) with
-         | (BBranch b, []) =>                         (* dirty branch: `db/branch` is the branch's working set *)
-           match branch_working r b with
-           | Some w => match assoc t (d_schema w) with
-                       | Some cols => ans_eqb a (ARows cols (rows_of t (d_data w)))
-                       | None => is_error a
-                       end
-           | None => is_error a
-           end
-         | _ => match a with ARows _ _ | AHist _ _ => want_commit r v t a | _ => true end   (* refusing is fine; rows must be the right ones *)
-         end
-n    if revdb_denotes r v then want_commit r v t a
-    else match (norm_base r (fst v), snd v) with
-         | (BBranch b, []) =>                         (* dirty branch: `db/branch` is the branch's working set *)
-           match branch_working r b with
-           | Some w => match assoc t (d_schema w) with
-                       | Some cols => ans_eqb a (ARows cols (rows_of t (d_data w)))
-                       | None => is_error a
-                       end
-           | None => is_error a
-           end
-         | _ => match a with ARows _ _ | AHist _ _ => want_commit r v t a | _ => true end   (* refusing is fine; rows must be the right ones *)
-         end
-e    if revdb_denotes r v then want_commit r v t a
-    else match (norm_base r (fst v), snd v) with
-         | (BBranch b, []) =>                         (* dirty branch: `db/branch` is the branch's working set *)
-           match branch_working r b with
-           | Some w => match assoc t (d_schema w) with
-                       | Some cols => ans_eqb a (ARows cols (rows_of t (d_data w)))
-                       | None => is_error a
-                       end
-           | None => is_error a
-           end
-         | _ => match a with ARows _ _ | AHist _ _ => want_commit r v t a | _ => true end   (* refusing is fine; rows must be the right ones *)
-         end
-s    if revdb_denotes r v then want_commit r v t a
-    else match (norm_base r (fst v), snd v) with
-         | (BBranch b, []) =>                         (* dirty branch: `db/branch` is the branch's working set *)
-           match branch_working r b with
-           | Some w => match assoc t (d_schema w) with
-                       | Some cols => ans_eqb a (ARows cols (rows_of t (d_data w)))
-                       | None => is_error a
-                       end
-           | None => is_error a
-           end
-         | _ => match a with ARows _ _ | AHist _ _ => want_commit r v t a | _ => true end   (* refusing is fine; rows must be the right ones *)
-         end
-     if revdb_denotes r v then want_commit r v t a
-    else match (norm_base r (fst v), snd v) with
-         | (BBranch b, []) =>                         (* dirty branch: `db/branch` is the branch's working set *)
-           match branch_working r b with
-           | Some w => match assoc t (d_schema w) with
-                       | Some cols => ans_eqb a (ARows cols (rows_of t (d_data w)))
-                       | None => is_error a
-                       end
-           | None => is_error a
-           end
-         | _ => match a with ARows _ _ | AHist _ _ => want_commit r v t a | _ => true end   (* refusing is fine; rows must be the right ones *)
-         end
-*    if revdb_denotes r v then want_commit r v t a
-    else match (norm_base r (fst v), snd v) with
-         | (BBranch b, []) =>                         (* dirty branch: `db/branch` is the branch's working set *)
-           match branch_working r b with
-           | Some w => match assoc t (d_schema w) with
-                       | Some cols => ans_eqb a (ARows cols (rows_of t (d_data w)))
-                       | None => is_error a
-                       end
-           | None => is_error a
-           end
-         | _ => match a with ARows _ _ | AHist _ _ => want_commit r v t a | _ => true end   (* refusing is fine; rows must be the right ones *)
-         end
-)    if revdb_denotes r v then want_commit r v t a
-    else match (norm_base r (fst v), snd v) with
-         | (BBranch b, []) =>                         (* dirty branch: `db/branch` is the branch's working set *)
-           match branch_working r b with
-           | Some w => match assoc t (d_schema w) with
-                       | Some cols => ans_eqb a (ARows cols (rows_of t (d_data w)))
-                       | None => is_error a
-                       end
-           | None => is_error a
-           end
-         | _ => match a with ARows _ _ | AHist _ _ => want_commit r v t a | _ => true end   (* refusing is fine; rows must be the right ones *)
-         end
-
-    if revdb_denotes r v then want_commit r v t a
-    else match (norm_base r (fst v), snd v) with
-         | (BBranch b, []) =>                         (* dirty branch: `db/branch` is the branch's working set *)
-           match branch_working r b with
-           | Some w => match assoc t (d_schema w) with
-                       | Some cols => ans_eqb a (ARows cols (rows_of t (d_data w)))
-                       | None => is_error a
-                       end
-           | None => is_error a
-           end
-         | _ => match a with ARows _ _ | AHist _ _ => want_commit r v t a | _ => true end   (* refusing is fine; rows must be the right ones *)
-         end
-     if revdb_denotes r v then want_commit r v t a
-    else match (norm_base r (fst v), snd v) with
-         | (BBranch b, []) =>                         (* dirty branch: `db/branch` is the branch's working set *)
-           match branch_working r b with
-           | Some w => match assoc t (d_schema w) with
-                       | Some cols => ans_eqb a (ARows cols (rows_of t (d_data w)))
-                       | None => is_error a
-                       end
-           | None => is_error a
-           end
-         | _ => match a with ARows _ _ | AHist _ _ => want_commit r v t a | _ => true end   (* refusing is fine; rows must be the right ones *)
-         end
-     if revdb_denotes r v then want_commit r v t a
-    else match (norm_base r (fst v), snd v) with
-         | (BBranch b, []) =>                         (* dirty branch: `db/branch` is the branch's working set *)
-           match branch_working r b with
-           | Some w => match assoc t (d_schema w) with
-                       | Some cols => ans_eqb a (ARows cols (rows_of t (d_data w)))
-                       | None => is_error a
-                       end
-           | None => is_error a
-           end
-         | _ => match a with ARows _ _ | AHist _ _ => want_commit r v t a | _ => true end   (* refusing is fine; rows must be the right ones *)
-         end
-     if revdb_denotes r v then want_commit r v t a
-    else match (norm_base r (fst v), snd v) with
-         | (BBranch b, []) =>                         (* dirty branch: `db/branch` is the branch's working set *)
-           match branch_working r b with
-           | Some w => match assoc t (d_schema w) with
-                       | Some cols => ans_eqb a (ARows cols (rows_of t (d_data w)))
-                       | None => is_error a
-                       end
-           | None => is_error a
-           end
-         | _ => match a with ARows _ _ | AHist _ _ => want_commit r v t a | _ => true end   (* refusing is fine; rows must be the right ones *)
-         end
-     if revdb_denotes r v then want_commit r v t a
-    else match (norm_base r (fst v), snd v) with
-         | (BBranch b, []) =>                         (* dirty branch: `db/branch` is the branch's working set *)
-           match branch_working r b with
-           | Some w => match assoc t (d_schema w) with
-                       | Some cols => ans_eqb a (ARows cols (rows_of t (d_data w)))
-                       | None => is_error a
-                       end
-           | None => is_error a
-           end
-         | _ => match a with ARows _ _ | AHist _ _ => want_commit r v t a | _ => true end   (* refusing is fine; rows must be the right ones *)
-         end
-     if revdb_denotes r v then want_commit r v t a
-    else match (norm_base r (fst v), snd v) with
-         | (BBranch b, []) =>                         (* dirty branch: `db/branch` is the branch's working set *)
-           match branch_working r b with
-           | Some w => match assoc t (d_schema w) with
-                       | Some cols => ans_eqb a (ARows cols (rows_of t (d_data w)))
-                       | None => is_error a
-                       end
-           | None => is_error a
-           end
-         | _ => match a with ARows _ _ | AHist _ _ => want_commit r v t a | _ => true end   (* refusing is fine; rows must be the right ones *)
-         end
-     if revdb_denotes r v then want_commit r v t a
-    else match (norm_base r (fst v), snd v) with
-         | (BBranch b, []) =>                         (* dirty branch: `db/branch` is the branch's working set *)
-           match branch_working r b with
-           | Some w => match assoc t (d_schema w) with
-                       | Some cols => ans_eqb a (ARows cols (rows_of t (d_data w)))
-                       | None => is_error a
-                       end
-           | None => is_error a
-           end
-         | _ => match a with ARows _ _ | AHist _ _ => want_commit r v t a | _ => true end   (* refusing is fine; rows must be the right ones *)
-         end
-     if revdb_denotes r v then want_commit r v t a
-    else match (norm_base r (fst v), snd v) with
-         | (BBranch b, []) =>                         (* dirty branch: `db/branch` is the branch's working set *)
-           match branch_working r b with
-           | Some w => match assoc t (d_schema w) with
-                       | Some cols => ans_eqb a (ARows cols (rows_of t (d_data w)))
-                       | None => is_error a
-                       end
-           | None => is_error a
-           end
-         | _ => match a with ARows _ _ | AHist _ _ => want_commit r v t a | _ => true end   (* refusing is fine; rows must be the right ones *)
-         end
-     if revdb_denotes r v then want_commit r v t a
-    else match (norm_base r (fst v), snd v) with
-         | (BBranch b, []) =>                         (* dirty branch: `db/branch` is the branch's working set *)
-           match branch_working r b with
-           | Some w => match assoc t (d_schema w) with
-                       | Some cols => ans_eqb a (ARows cols (rows_of t (d_data w)))
-                       | None => is_error a
-                       end
-           | None => is_error a
-           end
-         | _ => match a with ARows _ _ | AHist _ _ => want_commit r v t a | _ => true end   (* refusing is fine; rows must be the right ones *)
-         end
-     if revdb_denotes r v then want_commit r v t a
-    else match (norm_base r (fst v), snd v) with
-         | (BBranch b, []) =>                         (* dirty branch: `db/branch` is the branch's working set *)
-           match branch_working r b with
-           | Some w => match assoc t (d_schema w) with
-                       | Some cols => ans_eqb a (ARows cols (rows_of t (d_data w)))
-                       | None => is_error a
-                       end
-           | None => is_error a
-           end
-         | _ => match a with ARows _ _ | AHist _ _ => want_commit r v t a | _ => true end   (* refusing is fine; rows must be the right ones *)
-         end
-e    if revdb_denotes r v then want_commit r v t a
-    else match (norm_base r (fst v), snd v) with
-         | (BBranch b, []) =>                         (* dirty branch: `db/branch` is the branch's working set *)
-           match branch_working r b with
-           | Some w => match assoc t (d_schema w) with
-                       | Some cols => ans_eqb a (ARows cols (rows_of t (d_data w)))
-                       | None => is_error a
-                       end
-           | None => is_error a
-           end
-         | _ => match a with ARows _ _ | AHist _ _ => want_commit r v t a | _ => true end   (* refusing is fine; rows must be the right ones *)
-         end
-n    if revdb_denotes r v then want_commit r v t a
-    else match (norm_base r (fst v), snd v) with
-         | (BBranch b, []) =>                         (* dirty branch: `db/branch` is the branch's working set *)
-           match branch_working r b with
-           | Some w => match assoc t (d_schema w) with
-                       | Some cols => ans_eqb a (ARows cols (rows_of t (d_data w)))
-                       | None => is_error a
-                       end
-           | None => is_error a
-           end
-         | _ => match a with ARows _ _ | AHist _ _ => want_commit r v t a | _ => true end   (* refusing is fine; rows must be the right ones *)
-         end
-d    if revdb_denotes r v then want_commit r v t a
-    else match (norm_base r (fst v), snd v) with
-         | (BBranch b, []) =>                         (* dirty branch: `db/branch` is the branch's working set *)
-           match branch_working r b with
-           | Some w => match assoc t (d_schema w) with
-                       | Some cols => ans_eqb a (ARows cols (rows_of t (d_data w)))
-                       | None => is_error a
-                       end
-           | None => is_error a
-           end
-         | _ => match a with ARows _ _ | AHist _ _ => want_commit r v t a | _ => true end   (* refusing is fine; rows must be the right ones *)
-         end
-
-    if revdb_denotes r v then want_commit r v t a
-    else match (norm_base r (fst v), snd v) with
-         | (BBranch b, []) =>                         (* dirty branch: `db/branch` is the branch's working set *)
-           match branch_working r b with
-           | Some w => match assoc t (d_schema w) with
-                       | Some cols => ans_eqb a (ARows cols (rows_of t (d_data w)))
-                       | None => is_error a
-                       end
-           | None => is_error a
-           end
-         | _ => match a with ARows _ _ | AHist _ _ => want_commit r v t a | _ => true end   (* refusing is fine; rows must be the right ones *)
-         end
-     if revdb_denotes r v then want_commit r v t a
-    else match (norm_base r (fst v), snd v) with
-         | (BBranch b, []) =>                         (* dirty branch: `db/branch` is the branch's working set *)
-           match branch_working r b with
-           | Some w => match assoc t (d_schema w) with
-                       | Some cols => ans_eqb a (ARows cols (rows_of t (d_data w)))
-                       | None => is_error a
-                       end
-           | None => is_error a
-           end
-         | _ => match a with ARows _ _ | AHist _ _ => want_commit r v t a | _ => true end   (* refusing is fine; rows must be the right ones *)
-         end
-     if revdb_denotes r v then want_commit r v t a
-    else match (norm_base r (fst v), snd v) with
-         | (BBranch b, []) =>                         (* dirty branch: `db/branch` is the branch's working set *)
-           match branch_working r b with
-           | Some w => match assoc t (d_schema w) with
-                       | Some cols => ans_eqb a (ARows cols (rows_of t (d_data w)))
-                       | None => is_error a
-                       end
-           | None => is_error a
-           end
-         | _ => match a with ARows _ _ | AHist _ _ => want_commit r v t a | _ => true end   (* refusing is fine; rows must be the right ones *)
-         end
-|    if revdb_denotes r v then want_commit r v t a
-    else match (norm_base r (fst v), snd v) with
-         | (BBranch b, []) =>                         (* dirty branch: `db/branch` is the branch's working set *)
-           match branch_working r b with
-           | Some w => match assoc t (d_schema w) with
-                       | Some cols => ans_eqb a (ARows cols (rows_of t (d_data w)))
-                       | None => is_error a
-                       end
-           | None => is_error a
-           end
-         | _ => match a with ARows _ _ | AHist _ _ => want_commit r v t a | _ => true end   (* refusing is fine; rows must be the right ones *)
-         end
-     if revdb_denotes r v then want_commit r v t a
-    else match (norm_base r (fst v), snd v) with
-         | (BBranch b, []) =>                         (* dirty branch: `db/branch` is the branch's working set *)
-           match branch_working r b with
-           | Some w => match assoc t (d_schema w) with
-                       | Some cols => ans_eqb a (ARows cols (rows_of t (d_data w)))
-                       | None => is_error a
-                       end
-           | None => is_error a
-           end
-         | _ => match a with ARows _ _ | AHist _ _ => want_commit r v t a | _ => true end   (* refusing is fine; rows must be the right ones *)
-         end
-Q    if revdb_denotes r v then want_commit r v t a
-    else match (norm_base r (fst v), snd v) with
-         | (BBranch b, []) =>                         (* dirty branch: `db/branch` is the branch's working set *)
-           match branch_working r b with
-           | Some w => match assoc t (d_schema w) with
-                       | Some cols => ans_eqb a (ARows cols (rows_of t (d_data w)))
-                       | None => is_error a
-                       end
-           | None => is_error a
-           end
-         | _ => match a with ARows _ _ | AHist _ _ => want_commit r v t a | _ => true end   (* refusing is fine; rows must be the right ones *)
-         end
-H    if revdb_denotes r v then want_commit r v t a
-    else match (norm_base r (fst v), snd v) with
-         | (BBranch b, []) =>                         (* dirty branch: `db/branch` is the branch's working set *)
-           match branch_working r b with
-           | Some w => match assoc t (d_schema w) with
-                       | Some cols => ans_eqb a (ARows cols (rows_of t (d_data w)))
-                       | None => is_error a
-                       end
-           | None => is_error a
-           end
-         | _ => match a with ARows _ _ | AHist _ _ => want_commit r v t a | _ => true end   (* refusing is fine; rows must be the right ones *)
-         end
-i    if revdb_denotes r v then want_commit r v t a
-    else match (norm_base r (fst v), snd v) with
-         | (BBranch b, []) =>                         (* dirty branch: `db/branch` is the branch's working set *)
-           match branch_working r b with
-           | Some w => match assoc t (d_schema w) with
-                       | Some cols => ans_eqb a (ARows cols (rows_of t (d_data w)))
-                       | None => is_error a
-                       end
-           | None => is_error a
-           end
-         | _ => match a with ARows _ _ | AHist _ _ => want_commit r v t a | _ => true end   (* refusing is fine; rows must be the right ones *)
-         end
-s    if revdb_denotes r v then want_commit r v t a
-    else match (norm_base r (fst v), snd v) with
-         | (BBranch b, []) =>                         (* dirty branch: `db/branch` is the branch's working set *)
-           match branch_working r b with
-           | Some w => match assoc t (d_schema w) with
-                       | Some cols => ans_eqb a (ARows cols (rows_of t (d_data w)))
-                       | None => is_error a
-                       end
-           | None => is_error a
-           end
-         | _ => match a with ARows _ _ | AHist _ _ => want_commit r v t a | _ => true end   (* refusing is fine; rows must be the right ones *)
-         end
-t    if revdb_denotes r v then want_commit r v t a
-    else match (norm_base r (fst v), snd v) with
-         | (BBranch b, []) =>                         (* dirty branch: `db/branch` is the branch's working set *)
-           match branch_working r b with
-           | Some w => match assoc t (d_schema w) with
-                       | Some cols => ans_eqb a (ARows cols (rows_of t (d_data w)))
-                       | None => is_error a
-                       end
-           | None => is_error a
-           end
-         | _ => match a with ARows _ _ | AHist _ _ => want_commit r v t a | _ => true end   (* refusing is fine; rows must be the right ones *)
-         end
-A    if revdb_denotes r v then want_commit r v t a
-    else match (norm_base r (fst v), snd v) with
-         | (BBranch b, []) =>                         (* dirty branch: `db/branch` is the branch's working set *)
-           match branch_working r b with
-           | Some w => match assoc t (d_schema w) with
-                       | Some cols => ans_eqb a (ARows cols (rows_of t (d_data w)))
-                       | None => is_error a
-                       end
-           | None => is_error a
-           end
-         | _ => match a with ARows _ _ | AHist _ _ => want_commit r v t a | _ => true end   (* refusing is fine; rows must be the right ones *)
-         end
-t    if revdb_denotes r v then want_commit r v t a
-    else match (norm_base r (fst v), snd v) with
-         | (BBranch b, []) =>                         (* dirty branch: `db/branch` is the branch's working set *)
-           match branch_working r b with
-           | Some w => match assoc t (d_schema w) with
-                       | Some cols => ans_eqb a (ARows cols (rows_of t (d_data w)))
-                       | None => is_error a
-                       end
-           | None => is_error a
-           end
-         | _ => match a with ARows _ _ | AHist _ _ => want_commit r v t a | _ => true end   (* refusing is fine; rows must be the right ones *)
-         end
-     if revdb_denotes r v then want_commit r v t a
-    else match (norm_base r (fst v), snd v) with
-         | (BBranch b, []) =>                         (* dirty branch: `db/branch` is the branch's working set *)
-           match branch_working r b with
-           | Some w => match assoc t (d_schema w) with
-                       | Some cols => ans_eqb a (ARows cols (rows_of t (d_data w)))
-                       | None => is_error a
-                       end
-           | None => is_error a
-           end
-         | _ => match a with ARows _ _ | AHist _ _ => want_commit r v t a | _ => true end   (* refusing is fine; rows must be the right ones *)
-         end
-c    if revdb_denotes r v then want_commit r v t a
-    else match (norm_base r (fst v), snd v) with
-         | (BBranch b, []) =>                         (* dirty branch: `db/branch` is the branch's working set *)
-           match branch_working r b with
-           | Some w => match assoc t (d_schema w) with
-                       | Some cols => ans_eqb a (ARows cols (rows_of t (d_data w)))
-                       | None => is_error a
-                       end
-           | None => is_error a
-           end
-         | _ => match a with ARows _ _ | AHist _ _ => want_commit r v t a | _ => true end   (* refusing is fine; rows must be the right ones *)
-         end
-     if revdb_denotes r v then want_commit r v t a
-    else match (norm_base r (fst v), snd v) with
-         | (BBranch b, []) =>                         (* dirty branch: `db/branch` is the branch's working set *)
-           match branch_working r b with
-           | Some w => match assoc t (d_schema w) with
-                       | Some cols => ans_eqb a (ARows cols (rows_of t (d_data w)))
-                       | None => is_error a
-                       end
-           | None => is_error a
-           end
-         | _ => match a with ARows _ _ | AHist _ _ => want_commit r v t a | _ => true end   (* refusing is fine; rows must be the right ones *)
-         end
-t    if revdb_denotes r v then want_commit r v t a
-    else match (norm_base r (fst v), snd v) with
-         | (BBranch b, []) =>                         (* dirty branch: `db/branch` is the branch's working set *)
-           match branch_working r b with
-           | Some w => match assoc t (d_schema w) with
-                       | Some cols => ans_eqb a (ARows cols (rows_of t (d_data w)))
-                       | None => is_error a
-                       end
-           | None => is_error a
-           end
-         | _ => match a with ARows _ _ | AHist _ _ => want_commit r v t a | _ => true end   (* refusing is fine; rows must be the right ones *)
-         end
-     if revdb_denotes r v then want_commit r v t a
-    else match (norm_base r (fst v), snd v) with
-         | (BBranch b, []) =>                         (* dirty branch: `db/branch` is the branch's working set *)
-           match branch_working r b with
-           | Some w => match assoc t (d_schema w) with
-                       | Some cols => ans_eqb a (ARows cols (rows_of t (d_data w)))
-                       | None => is_error a
-                       end
-           | None => is_error a
-           end
-         | _ => match a with ARows _ _ | AHist _ _ => want_commit r v t a | _ => true end   (* refusing is fine; rows must be the right ones *)
-         end
-=    if revdb_denotes r v then want_commit r v t a
-    else match (norm_base r (fst v), snd v) with
-         | (BBranch b, []) =>                         (* dirty branch: `db/branch` is the branch's working set *)
-           match branch_working r b with
-           | Some w => match assoc t (d_schema w) with
-                       | Some cols => ans_eqb a (ARows cols (rows_of t (d_data w)))
-                       | None => is_error a
-                       end
-           | None => is_error a
-           end
-         | _ => match a with ARows _ _ | AHist _ _ => want_commit r v t a | _ => true end   (* refusing is fine; rows must be the right ones *)
-         end
->    if revdb_denotes r v then want_commit r v t a
-    else match (norm_base r (fst v), snd v) with
-         | (BBranch b, []) =>                         (* dirty branch: `db/branch` is the branch's working set *)
-           match branch_working r b with
-           | Some w => match assoc t (d_schema w) with
-                       | Some cols => ans_eqb a (ARows cols (rows_of t (d_data w)))
-                       | None => is_error a
-                       end
-           | None => is_error a
-           end
-         | _ => match a with ARows _ _ | AHist _ _ => want_commit r v t a | _ => true end   (* refusing is fine; rows must be the right ones *)
-         end
-
-    if revdb_denotes r v then want_commit r v t a
-    else match (norm_base r (fst v), snd v) with
-         | (BBranch b, []) =>                         (* dirty branch: `db/branch` is the branch's working set *)
-           match branch_working r b with
-           | Some w => match assoc t (d_schema w) with
-                       | Some cols => ans_eqb a (ARows cols (rows_of t (d_data w)))
-                       | None => is_error a
-                       end
-           | None => is_error a
-           end
-         | _ => match a with ARows _ _ | AHist _ _ => want_commit r v t a | _ => true end   (* refusing is fine; rows must be the right ones *)
-         end
-     if revdb_denotes r v then want_commit r v t a
-    else match (norm_base r (fst v), snd v) with
-         | (BBranch b, []) =>                         (* dirty branch: `db/branch` is the branch's working set *)
-           match branch_working r b with
-           | Some w => match assoc t (d_schema w) with
-                       | Some cols => ans_eqb a (ARows cols (rows_of t (d_data w)))
-                       | None => is_error a
-                       end
-           | None => is_error a
-           end
-         | _ => match a with ARows _ _ | AHist _ _ => want_commit r v t a | _ => true end   (* refusing is fine; rows must be the right ones *)
-         end
-     if revdb_denotes r v then want_commit r v t a
-    else match (norm_base r (fst v), snd v) with
-         | (BBranch b, []) =>                         (* dirty branch: `db/branch` is the branch's working set *)
-           match branch_working r b with
-           | Some w => match assoc t (d_schema w) with
-                       | Some cols => ans_eqb a (ARows cols (rows_of t (d_data w)))
-                       | None => is_error a
-                       end
-           | None => is_error a
-           end
-         | _ => match a with ARows _ _ | AHist _ _ => want_commit r v t a | _ => true end   (* refusing is fine; rows must be the right ones *)
-         end
-     if revdb_denotes r v then want_commit r v t a
-    else match (norm_base r (fst v), snd v) with
-         | (BBranch b, []) =>                         (* dirty branch: `db/branch` is the branch's working set *)
-           match branch_working r b with
-           | Some w => match assoc t (d_schema w) with
-                       | Some cols => ans_eqb a (ARows cols (rows_of t (d_data w)))
-                       | None => is_error a
-                       end
-           | None => is_error a
-           end
-         | _ => match a with ARows _ _ | AHist _ _ => want_commit r v t a | _ => true end   (* refusing is fine; rows must be the right ones *)
-         end
-     if revdb_denotes r v then want_commit r v t a
-    else match (norm_base r (fst v), snd v) with
-         | (BBranch b, []) =>                         (* dirty branch: `db/branch` is the branch's working set *)
-           match branch_working r b with
-           | Some w => match assoc t (d_schema w) with
-                       | Some cols => ans_eqb a (ARows cols (rows_of t (d_data w)))
-                       | None => is_error a
-                       end
-           | None => is_error a
-           end
-         | _ => match a with ARows _ _ | AHist _ _ => want_commit r v t a | _ => true end   (* refusing is fine; rows must be the right ones *)
-         end
-m    if revdb_denotes r v then want_commit r v t a
-    else match (norm_base r (fst v), snd v) with
-         | (BBranch b, []) =>                         (* dirty branch: `db/branch` is the branch's working set *)
-           match branch_working r b with
-           | Some w => match assoc t (d_schema w) with
-                       | Some cols => ans_eqb a (ARows cols (rows_of t (d_data w)))
-                       | None => is_error a
-                       end
-           | None => is_error a
-           end
-         | _ => match a with ARows _ _ | AHist _ _ => want_commit r v t a | _ => true end   (* refusing is fine; rows must be the right ones *)
-         end
-a    if revdb_denotes r v then want_commit r v t a
-    else match (norm_base r (fst v), snd v) with
-         | (BBranch b, []) =>                         (* dirty branch: `db/branch` is the branch's working set *)
-           match branch_working r b with
-           | Some w => match assoc t (d_schema w) with
-                       | Some cols => ans_eqb a (ARows cols (rows_of t (d_data w)))
-                       | None => is_error a
-                       end
-           | None => is_error a
-           end
-         | _ => match a with ARows _ _ | AHist _ _ => want_commit r v t a | _ => true end   (* refusing is fine; rows must be the right ones *)
-         end
-t    if revdb_denotes r v then want_commit r v t a
-    else match (norm_base r (fst v), snd v) with
-         | (BBranch b, []) =>                         (* dirty branch: `db/branch` is the branch's working set *)
-           match branch_working r b with
-           | Some w => match assoc t (d_schema w) with
-                       | Some cols => ans_eqb a (ARows cols (rows_of t (d_data w)))
-                       | None => is_error a
-                       end
-           | None => is_error a
-           end
-         | _ => match a with ARows _ _ | AHist _ _ => want_commit r v t a | _ => true end   (* refusing is fine; rows must be the right ones *)
-         end
-c    if revdb_denotes r v then want_commit r v t a
-    else match (norm_base r (fst v), snd v) with
-         | (BBranch b, []) =>                         (* dirty branch: `db/branch` is the branch's working set *)
-           match branch_working r b with
-           | Some w => match assoc t (d_schema w) with
-                       | Some cols => ans_eqb a (ARows cols (rows_of t (d_data w)))
-                       | None => is_error a
-                       end
-           | None => is_error a
-           end
-         | _ => match a with ARows _ _ | AHist _ _ => want_commit r v t a | _ => true end   (* refusing is fine; rows must be the right ones *)
-         end
-h    if revdb_denotes r v then want_commit r v t a
-    else match (norm_base r (fst v), snd v) with
-         | (BBranch b, []) =>                         (* dirty branch: `db/branch` is the branch's working set *)
-           match branch_working r b with
-           | Some w => match assoc t (d_schema w) with
-                       | Some cols => ans_eqb a (ARows cols (rows_of t (d_data w)))
-                       | None => is_error a
-                       end
-           | None => is_error a
-           end
-         | _ => match a with ARows _ _ | AHist _ _ => want_commit r v t a | _ => true end   (* refusing is fine; rows must be the right ones *)
-         end
-     if revdb_denotes r v then want_commit r v t a
-    else match (norm_base r (fst v), snd v) with
-         | (BBranch b, []) =>                         (* dirty branch: `db/branch` is the branch's working set *)
-           match branch_working r b with
-           | Some w => match assoc t (d_schema w) with
-                       | Some cols => ans_eqb a (ARows cols (rows_of t (d_data w)))
-                       | None => is_error a
-                       end
-           | None => is_error a
-           end
-         | _ => match a with ARows _ _ | AHist _ _ => want_commit r v t a | _ => true end   (* refusing is fine; rows must be the right ones *)
-         end
-c    if revdb_denotes r v then want_commit r v t a
-    else match (norm_base r (fst v), snd v) with
-         | (BBranch b, []) =>                         (* dirty branch: `db/branch` is the branch's working set *)
-           match branch_working r b with
-           | Some w => match assoc t (d_schema w) with
-                       | Some cols => ans_eqb a (ARows cols (rows_of t (d_data w)))
-                       | None => is_error a
-                       end
-           | None => is_error a
-           end
-         | _ => match a with ARows _ _ | AHist _ _ => want_commit r v t a | _ => true end   (* refusing is fine; rows must be the right ones *)
-         end
-u    if revdb_denotes r v then want_commit r v t a
-    else match (norm_base r (fst v), snd v) with
-         | (BBranch b, []) =>                         (* dirty branch: `db/branch` is the branch's working set *)
-           match branch_working r b with
-           | Some w => match assoc t (d_schema w) with
-                       | Some cols => ans_eqb a (ARows cols (rows_of t (d_data w)))
-                       | None => is_error a
-                       end
-           | None => is_error a
-           end
-         | _ => match a with ARows _ _ | AHist _ _ => want_commit r v t a | _ => true end   (* refusing is fine; rows must be the right ones *)
-         end
-r    if revdb_denotes r v then want_commit r v t a
-    else match (norm_base r (fst v), snd v) with
-         | (BBranch b, []) =>                         (* dirty branch: `db/branch` is the branch's working set *)
-           match branch_working r b with
-           | Some w => match assoc t (d_schema w) with
-                       | Some cols => ans_eqb a (ARows cols (rows_of t (d_data w)))
-                       | None => is_error a
-                       end
-           | None => is_error a
-           end
-         | _ => match a with ARows _ _ | AHist _ _ => want_commit r v t a | _ => true end   (* refusing is fine; rows must be the right ones *)
-         end
-_    if revdb_denotes r v then want_commit r v t a
-    else match (norm_base r (fst v), snd v) with
-         | (BBranch b, []) =>                         (* dirty branch: `db/branch` is the branch's working set *)
-           match branch_working r b with
-           | Some w => match assoc t (d_schema w) with
-                       | Some cols => ans_eqb a (ARows cols (rows_of t (d_data w)))
-                       | None => is_error a
-                       end
-           | None => is_error a
-           end
-         | _ => match a with ARows _ _ | AHist _ _ => want_commit r v t a | _ => true end   (* refusing is fine; rows must be the right ones *)
-         end
-s    if revdb_denotes r v then want_commit r v t a
-    else match (norm_base r (fst v), snd v) with
-         | (BBranch b, []) =>                         (* dirty branch: `db/branch` is the branch's working set *)
-           match branch_working r b with
-           | Some w => match assoc t (d_schema w) with
-                       | Some cols => ans_eqb a (ARows cols (rows_of t (d_data w)))
-                       | None => is_error a
-                       end
-           | None => is_error a
-           end
-         | _ => match a with ARows _ _ | AHist _ _ => want_commit r v t a | _ => true end   (* refusing is fine; rows must be the right ones *)
-         end
-c    if revdb_denotes r v then want_commit r v t a
-    else match (norm_base r (fst v), snd v) with
-         | (BBranch b, []) =>                         (* dirty branch: `db/branch` is the branch's working set *)
-           match branch_working r b with
-           | Some w => match assoc t (d_schema w) with
-                       | Some cols => ans_eqb a (ARows cols (rows_of t (d_data w)))
-                       | None => is_error a
-                       end
-           | None => is_error a
-           end
-         | _ => match a with ARows _ _ | AHist _ _ => want_commit r v t a | _ => true end   (* refusing is fine; rows must be the right ones *)
-         end
-h    if revdb_denotes r v then want_commit r v t a
-    else match (norm_base r (fst v), snd v) with
-         | (BBranch b, []) =>                         (* dirty branch: `db/branch` is the branch's working set *)
-           match branch_working r b with
-           | Some w => match assoc t (d_schema w) with
-                       | Some cols => ans_eqb a (ARows cols (rows_of t (d_data w)))
-                       | None => is_error a
-                       end
-           | None => is_error a
-           end
-         | _ => match a with ARows _ _ | AHist _ _ => want_commit r v t a | _ => true end   (* refusing is fine; rows must be the right ones *)
-         end
-e    if revdb_denotes r v then want_commit r v t a
-    else match (norm_base r (fst v), snd v) with
-         | (BBranch b, []) =>                         (* dirty branch: `db/branch` is the branch's working set *)
-           match branch_working r b with
-           | Some w => match assoc t (d_schema w) with
-                       | Some cols => ans_eqb a (ARows cols (rows_of t (d_data w)))
-                       | None => is_error a
-                       end
-           | None => is_error a
-           end
-         | _ => match a with ARows _ _ | AHist _ _ => want_commit r v t a | _ => true end   (* refusing is fine; rows must be the right ones *)
-         end
-m    if revdb_denotes r v then want_commit r v t a
-    else match (norm_base r (fst v), snd v) with
-         | (BBranch b, []) =>                         (* dirty branch: `db/branch` is the branch's working set *)
-           match branch_working r b with
-           | Some w => match assoc t (d_schema w) with
-                       | Some cols => ans_eqb a (ARows cols (rows_of t (d_data w)))
-                       | None => is_error a
-                       end
-           | None => is_error a
-           end
-         | _ => match a with ARows _ _ | AHist _ _ => want_commit r v t a | _ => true end   (* refusing is fine; rows must be the right ones *)
-         end
-a    if revdb_denotes r v then want_commit r v t a
-    else match (norm_base r (fst v), snd v) with
-         | (BBranch b, []) =>                         (* dirty branch: `db/branch` is the branch's working set *)
-           match branch_working r b with
-           | Some w => match assoc t (d_schema w) with
-                       | Some cols => ans_eqb a (ARows cols (rows_of t (d_data w)))
-                       | None => is_error a
-                       end
-           | None => is_error a
-           end
-         | _ => match a with ARows _ _ | AHist _ _ => want_commit r v t a | _ => true end   (* refusing is fine; rows must be the right ones *)
-         end
-     if revdb_denotes r v then want_commit r v t a
-    else match (norm_base r (fst v), snd v) with
-         | (BBranch b, []) =>                         (* dirty branch: `db/branch` is the branch's working set *)
-           match branch_working r b with
-           | Some w => match assoc t (d_schema w) with
-                       | Some cols => ans_eqb a (ARows cols (rows_of t (d_data w)))
-                       | None => is_error a
-                       end
-           | None => is_error a
-           end
-         | _ => match a with ARows _ _ | AHist _ _ => want_commit r v t a | _ => true end   (* refusing is fine; rows must be the right ones *)
-         end
-r    if revdb_denotes r v then want_commit r v t a
-    else match (norm_base r (fst v), snd v) with
-         | (BBranch b, []) =>                         (* dirty branch: `db/branch` is the branch's working set *)
-           match branch_working r b with
-           | Some w => match assoc t (d_schema w) with
-                       | Some cols => ans_eqb a (ARows cols (rows_of t (d_data w)))
-                       | None => is_error a
-                       end
-           | None => is_error a
-           end
-         | _ => match a with ARows _ _ | AHist _ _ => want_commit r v t a | _ => true end   (* refusing is fine; rows must be the right ones *)
-         end
-     if revdb_denotes r v then want_commit r v t a
-    else match (norm_base r (fst v), snd v) with
-         | (BBranch b, []) =>                         (* dirty branch: `db/branch` is the branch's working set *)
-           match branch_working r b with
-           | Some w => match assoc t (d_schema w) with
-                       | Some cols => ans_eqb a (ARows cols (rows_of t (d_data w)))
-                       | None => is_error a
-                       end
-           | None => is_error a
-           end
-         | _ => match a with ARows _ _ | AHist _ _ => want_commit r v t a | _ => true end   (* refusing is fine; rows must be the right ones *)
-         end
-t    if revdb_denotes r v then want_commit r v t a
-    else match (norm_base r (fst v), snd v) with
-         | (BBranch b, []) =>                         (* dirty branch: `db/branch` is the branch's working set *)
-           match branch_working r b with
-           | Some w => match assoc t (d_schema w) with
-                       | Some cols => ans_eqb a (ARows cols (rows_of t (d_data w)))
-                       | None => is_error a
-                       end
-           | None => is_error a
-           end
-         | _ => match a with ARows _ _ | AHist _ _ => want_commit r v t a | _ => true end   (* refusing is fine; rows must be the right ones *)
-         end
-     if revdb_denotes r v then want_commit r v t a
-    else match (norm_base r (fst v), snd v) with
-         | (BBranch b, []) =>                         (* dirty branch: `db/branch` is the branch's working set *)
-           match branch_working r b with
-           | Some w => match assoc t (d_schema w) with
-                       | Some cols => ans_eqb a (ARows cols (rows_of t (d_data w)))
-                       | None => is_error a
-                       end
-           | None => is_error a
-           end
-         | _ => match a with ARows _ _ | AHist _ _ => want_commit r v t a | _ => true end   (* refusing is fine; rows must be the right ones *)
-         end
-w    if revdb_denotes r v then want_commit r v t a
-    else match (norm_base r (fst v), snd v) with
-         | (BBranch b, []) =>                         (* dirty branch: `db/branch` is the branch's working set *)
-           match branch_working r b with
-           | Some w => match assoc t (d_schema w) with
-                       | Some cols => ans_eqb a (ARows cols (rows_of t (d_data w)))
-                       | None => is_error a
-                       end
-           | None => is_error a
-           end
-         | _ => match a with ARows _ _ | AHist _ _ => want_commit r v t a | _ => true end   (* refusing is fine; rows must be the right ones *)
-         end
-i    if revdb_denotes r v then want_commit r v t a
-    else match (norm_base r (fst v), snd v) with
-         | (BBranch b, []) =>                         (* dirty branch: `db/branch` is the branch's working set *)
-           match branch_working r b with
-           | Some w => match assoc t (d_schema w) with
-                       | Some cols => ans_eqb a (ARows cols (rows_of t (d_data w)))
-                       | None => is_error a
-                       end
-           | None => is_error a
-           end
-         | _ => match a with ARows _ _ | AHist _ _ => want_commit r v t a | _ => true end   (* refusing is fine; rows must be the right ones *)
-         end
-t    if revdb_denotes r v then want_commit r v t a
-    else match (norm_base r (fst v), snd v) with
-         | (BBranch b, []) =>                         (* dirty branch: `db/branch` is the branch's working set *)
-           match branch_working r b with
-           | Some w => match assoc t (d_schema w) with
-                       | Some cols => ans_eqb a (ARows cols (rows_of t (d_data w)))
-                       | None => is_error a
-                       end
-           | None => is_error a
-           end
-         | _ => match a with ARows _ _ | AHist _ _ => want_commit r v t a | _ => true end   (* refusing is fine; rows must be the right ones *)
-         end
-h    if revdb_denotes r v then want_commit r v t a
-    else match (norm_base r (fst v), snd v) with
-         | (BBranch b, []) =>                         (* dirty branch: `db/branch` is the branch's working set *)
-           match branch_working r b with
-           | Some w => match assoc t (d_schema w) with
-                       | Some cols => ans_eqb a (ARows cols (rows_of t (d_data w)))
-                       | None => is_error a
-                       end
-           | None => is_error a
-           end
-         | _ => match a with ARows _ _ | AHist _ _ => want_commit r v t a | _ => true end   (* refusing is fine; rows must be the right ones *)
-         end
-
-    if revdb_denotes r v then want_commit r v t a
-    else match (norm_base r (fst v), snd v) with
-         | (BBranch b, []) =>                         (* dirty branch: `db/branch` is the branch's working set *)
-           match branch_working r b with
-           | Some w => match assoc t (d_schema w) with
-                       | Some cols => ans_eqb a (ARows cols (rows_of t (d_data w)))
-                       | None => is_error a
-                       end
-           | None => is_error a
-           end
-         | _ => match a with ARows _ _ | AHist _ _ => want_commit r v t a | _ => true end   (* refusing is fine; rows must be the right ones *)
-         end
-     if revdb_denotes r v then want_commit r v t a
-    else match (norm_base r (fst v), snd v) with
-         | (BBranch b, []) =>                         (* dirty branch: `db/branch` is the branch's working set *)
-           match branch_working r b with
-           | Some w => match assoc t (d_schema w) with
-                       | Some cols => ans_eqb a (ARows cols (rows_of t (d_data w)))
-                       | None => is_error a
-                       end
-           | None => is_error a
-           end
-         | _ => match a with ARows _ _ | AHist _ _ => want_commit r v t a | _ => true end   (* refusing is fine; rows must be the right ones *)
-         end
-     if revdb_denotes r v then want_commit r v t a
-    else match (norm_base r (fst v), snd v) with
-         | (BBranch b, []) =>                         (* dirty branch: `db/branch` is the branch's working set *)
-           match branch_working r b with
-           | Some w => match assoc t (d_schema w) with
-                       | Some cols => ans_eqb a (ARows cols (rows_of t (d_data w)))
-                       | None => is_error a
-                       end
-           | None => is_error a
-           end
-         | _ => match a with ARows _ _ | AHist _ _ => want_commit r v t a | _ => true end   (* refusing is fine; rows must be the right ones *)
-         end
-     if revdb_denotes r v then want_commit r v t a
-    else match (norm_base r (fst v), snd v) with
-         | (BBranch b, []) =>                         (* dirty branch: `db/branch` is the branch's working set *)
-           match branch_working r b with
-           | Some w => match assoc t (d_schema w) with
-                       | Some cols => ans_eqb a (ARows cols (rows_of t (d_data w)))
-                       | None => is_error a
-                       end
-           | None => is_error a
-           end
-         | _ => match a with ARows _ _ | AHist _ _ => want_commit r v t a | _ => true end   (* refusing is fine; rows must be the right ones *)
-         end
-     if revdb_denotes r v then want_commit r v t a
-    else match (norm_base r (fst v), snd v) with
-         | (BBranch b, []) =>                         (* dirty branch: `db/branch` is the branch's working set *)
-           match branch_working r b with
-           | Some w => match assoc t (d_schema w) with
-                       | Some cols => ans_eqb a (ARows cols (rows_of t (d_data w)))
-                       | None => is_error a
-                       end
-           | None => is_error a
-           end
-         | _ => match a with ARows _ _ | AHist _ _ => want_commit r v t a | _ => true end   (* refusing is fine; rows must be the right ones *)
-         end
-|    if revdb_denotes r v then want_commit r v t a
-    else match (norm_base r (fst v), snd v) with
-         | (BBranch b, []) =>                         (* dirty branch: `db/branch` is the branch's working set *)
-           match branch_working r b with
-           | Some w => match assoc t (d_schema w) with
-                       | Some cols => ans_eqb a (ARows cols (rows_of t (d_data w)))
-                       | None => is_error a
-                       end
-           | None => is_error a
-           end
-         | _ => match a with ARows _ _ | AHist _ _ => want_commit r v t a | _ => true end   (* refusing is fine; rows must be the right ones *)
-         end
-     if revdb_denotes r v then want_commit r v t a
-    else match (norm_base r (fst v), snd v) with
-         | (BBranch b, []) =>                         (* dirty branch: `db/branch` is the branch's working set *)
-           match branch_working r b with
-           | Some w => match assoc t (d_schema w) with
-                       | Some cols => ans_eqb a (ARows cols (rows_of t (d_data w)))
-                       | None => is_error a
-                       end
-           | None => is_error a
-           end
-         | _ => match a with ARows _ _ | AHist _ _ => want_commit r v t a | _ => true end   (* refusing is fine; rows must be the right ones *)
-         end
-S    if revdb_denotes r v then want_commit r v t a
-    else match (norm_base r (fst v), snd v) with
-         | (BBranch b, []) =>                         (* dirty branch: `db/branch` is the branch's working set *)
-           match branch_working r b with
-           | Some w => match assoc t (d_schema w) with
-                       | Some cols => ans_eqb a (ARows cols (rows_of t (d_data w)))
-                       | None => is_error a
-                       end
-           | None => is_error a
-           end
-         | _ => match a with ARows _ _ | AHist _ _ => want_commit r v t a | _ => true end   (* refusing is fine; rows must be the right ones *)
-         end
-o    if revdb_denotes r v then want_commit r v t a
-    else match (norm_base r (fst v), snd v) with
-         | (BBranch b, []) =>                         (* dirty branch: `db/branch` is the branch's working set *)
-           match branch_working r b with
-           | Some w => match assoc t (d_schema w) with
-                       | Some cols => ans_eqb a (ARows cols (rows_of t (d_data w)))
-                       | None => is_error a
-                       end
-           | None => is_error a
-           end
-         | _ => match a with ARows _ _ | AHist _ _ => want_commit r v t a | _ => true end   (* refusing is fine; rows must be the right ones *)
-         end
-m    if revdb_denotes r v then want_commit r v t a
-    else match (norm_base r (fst v), snd v) with
-         | (BBranch b, []) =>                         (* dirty branch: `db/branch` is the branch's working set *)
-           match branch_working r b with
-           | Some w => match assoc t (d_schema w) with
-                       | Some cols => ans_eqb a (ARows cols (rows_of t (d_data w)))
-                       | None => is_error a
-                       end
-           | None => is_error a
-           end
-         | _ => match a with ARows _ _ | AHist _ _ => want_commit r v t a | _ => true end   (* refusing is fine; rows must be the right ones *)
-         end
-e    if revdb_denotes r v then want_commit r v t a
-    else match (norm_base r (fst v), snd v) with
-         | (BBranch b, []) =>                         (* dirty branch: `db/branch` is the branch's working set *)
-           match branch_working r b with
-           | Some w => match assoc t (d_schema w) with
-                       | Some cols => ans_eqb a (ARows cols (rows_of t (d_data w)))
-                       | None => is_error a
-                       end
-           | None => is_error a
-           end
-         | _ => match a with ARows _ _ | AHist _ _ => want_commit r v t a | _ => true end   (* refusing is fine; rows must be the right ones *)
-         end
-     if revdb_denotes r v then want_commit r v t a
-    else match (norm_base r (fst v), snd v) with
-         | (BBranch b, []) =>                         (* dirty branch: `db/branch` is the branch's working set *)
-           match branch_working r b with
-           | Some w => match assoc t (d_schema w) with
-                       | Some cols => ans_eqb a (ARows cols (rows_of t (d_data w)))
-                       | None => is_error a
-                       end
-           | None => is_error a
-           end
-         | _ => match a with ARows _ _ | AHist _ _ => want_commit r v t a | _ => true end   (* refusing is fine; rows must be the right ones *)
-         end
-t    if revdb_denotes r v then want_commit r v t a
-    else match (norm_base r (fst v), snd v) with
-         | (BBranch b, []) =>                         (* dirty branch: `db/branch` is the branch's working set *)
-           match branch_working r b with
-           | Some w => match assoc t (d_schema w) with
-                       | Some cols => ans_eqb a (ARows cols (rows_of t (d_data w)))
-                       | None => is_error a
-                       end
-           | None => is_error a
-           end
-         | _ => match a with ARows _ _ | AHist _ _ => want_commit r v t a | _ => true end   (* refusing is fine; rows must be the right ones *)
-         end
-g    if revdb_denotes r v then want_commit r v t a
-    else match (norm_base r (fst v), snd v) with
-         | (BBranch b, []) =>                         (* dirty branch: `db/branch` is the branch's working set *)
-           match branch_working r b with
-           | Some w => match assoc t (d_schema w) with
-                       | Some cols => ans_eqb a (ARows cols (rows_of t (d_data w)))
-                       | None => is_error a
-                       end
-           | None => is_error a
-           end
-         | _ => match a with ARows _ _ | AHist _ _ => want_commit r v t a | _ => true end   (* refusing is fine; rows must be the right ones *)
-         end
-t    if revdb_denotes r v then want_commit r v t a
-    else match (norm_base r (fst v), snd v) with
-         | (BBranch b, []) =>                         (* dirty branch: `db/branch` is the branch's working set *)
-           match branch_working r b with
-           | Some w => match assoc t (d_schema w) with
-                       | Some cols => ans_eqb a (ARows cols (rows_of t (d_data w)))
-                       | None => is_error a
-                       end
-           | None => is_error a
-           end
-         | _ => match a with ARows _ _ | AHist _ _ => want_commit r v t a | _ => true end   (* refusing is fine; rows must be the right ones *)
-         end
-     if revdb_denotes r v then want_commit r v t a
-    else match (norm_base r (fst v), snd v) with
-         | (BBranch b, []) =>                         (* dirty branch: `db/branch` is the branch's working set *)
-           match branch_working r b with
-           | Some w => match assoc t (d_schema w) with
-                       | Some cols => ans_eqb a (ARows cols (rows_of t (d_data w)))
-                       | None => is_error a
-                       end
-           | None => is_error a
-           end
-         | _ => match a with ARows _ _ | AHist _ _ => want_commit r v t a | _ => true end   (* refusing is fine; rows must be the right ones *)
-         end
-=    if revdb_denotes r v then want_commit r v t a
-    else match (norm_base r (fst v), snd v) with
-         | (BBranch b, []) =>                         (* dirty branch: `db/branch` is the branch's working set *)
-           match branch_working r b with
-           | Some w => match assoc t (d_schema w) with
-                       | Some cols => ans_eqb a (ARows cols (rows_of t (d_data w)))
-                       | None => is_error a
-                       end
-           | None => is_error a
-           end
-         | _ => match a with ARows _ _ | AHist _ _ => want_commit r v t a | _ => true end   (* refusing is fine; rows must be the right ones *)
-         end
->    if revdb_denotes r v then want_commit r v t a
-    else match (norm_base r (fst v), snd v) with
-         | (BBranch b, []) =>                         (* dirty branch: `db/branch` is the branch's working set *)
-           match branch_working r b with
-           | Some w => match assoc t (d_schema w) with
-                       | Some cols => ans_eqb a (ARows cols (rows_of t (d_data w)))
-                       | None => is_error a
-                       end
-           | None => is_error a
-           end
-         | _ => match a with ARows _ _ | AHist _ _ => want_commit r v t a | _ => true end   (* refusing is fine; rows must be the right ones *)
-         end
-     if revdb_denotes r v then want_commit r v t a
-    else match (norm_base r (fst v), snd v) with
-         | (BBranch b, []) =>                         (* dirty branch: `db/branch` is the branch's working set *)
-           match branch_working r b with
-           | Some w => match assoc t (d_schema w) with
-                       | Some cols => ans_eqb a (ARows cols (rows_of t (d_data w)))
-                       | None => is_error a
-                       end
-           | None => is_error a
-           end
-         | _ => match a with ARows _ _ | AHist _ _ => want_commit r v t a | _ => true end   (* refusing is fine; rows must be the right ones *)
-         end
-a    if revdb_denotes r v then want_commit r v t a
-    else match (norm_base r (fst v), snd v) with
-         | (BBranch b, []) =>                         (* dirty branch: `db/branch` is the branch's working set *)
-           match branch_working r b with
-           | Some w => match assoc t (d_schema w) with
-                       | Some cols => ans_eqb a (ARows cols (rows_of t (d_data w)))
-                       | None => is_error a
-                       end
-           | None => is_error a
-           end
-         | _ => match a with ARows _ _ | AHist _ _ => want_commit r v t a | _ => true end   (* refusing is fine; rows must be the right ones *)
-         end
-n    if revdb_denotes r v then want_commit r v t a
-    else match (norm_base r (fst v), snd v) with
-         | (BBranch b, []) =>                         (* dirty branch: `db/branch` is the branch's working set *)
-           match branch_working r b with
-           | Some w => match assoc t (d_schema w) with
-                       | Some cols => ans_eqb a (ARows cols (rows_of t (d_data w)))
-                       | None => is_error a
-                       end
-           | None => is_error a
-           end
-         | _ => match a with ARows _ _ | AHist _ _ => want_commit r v t a | _ => true end   (* refusing is fine; rows must be the right ones *)
-         end
-s    if revdb_denotes r v then want_commit r v t a
-    else match (norm_base r (fst v), snd v) with
-         | (BBranch b, []) =>                         (* dirty branch: `db/branch` is the branch's working set *)
-           match branch_working r b with
-           | Some w => match assoc t (d_schema w) with
-                       | Some cols => ans_eqb a (ARows cols (rows_of t (d_data w)))
-                       | None => is_error a
-                       end
-           | None => is_error a
-           end
-         | _ => match a with ARows _ _ | AHist _ _ => want_commit r v t a | _ => true end   (* refusing is fine; rows must be the right ones *)
-         end
-_    if revdb_denotes r v then want_commit r v t a
-    else match (norm_base r (fst v), snd v) with
-         | (BBranch b, []) =>                         (* dirty branch: `db/branch` is the branch's working set *)
-           match branch_working r b with
-           | Some w => match assoc t (d_schema w) with
-                       | Some cols => ans_eqb a (ARows cols (rows_of t (d_data w)))
-                       | None => is_error a
-                       end
-           | None => is_error a
-           end
-         | _ => match a with ARows _ _ | AHist _ _ => want_commit r v t a | _ => true end   (* refusing is fine; rows must be the right ones *)
-         end
-e    if revdb_denotes r v then want_commit r v t a
-    else match (norm_base r (fst v), snd v) with
-         | (BBranch b, []) =>                         (* dirty branch: `db/branch` is the branch's working set *)
-           match branch_working r b with
-           | Some w => match assoc t (d_schema w) with
-                       | Some cols => ans_eqb a (ARows cols (rows_of t (d_data w)))
-                       | None => is_error a
-                       end
-           | None => is_error a
-           end
-         | _ => match a with ARows _ _ | AHist _ _ => want_commit r v t a | _ => true end   (* refusing is fine; rows must be the right ones *)
-         end
-q    if revdb_denotes r v then want_commit r v t a
-    else match (norm_base r (fst v), snd v) with
-         | (BBranch b, []) =>                         (* dirty branch: `db/branch` is the branch's working set *)
-           match branch_working r b with
-           | Some w => match assoc t (d_schema w) with
-                       | Some cols => ans_eqb a (ARows cols (rows_of t (d_data w)))
-                       | None => is_error a
-                       end
-           | None => is_error a
-           end
-         | _ => match a with ARows _ _ | AHist _ _ => want_commit r v t a | _ => true end   (* refusing is fine; rows must be the right ones *)
-         end
-b    if revdb_denotes r v then want_commit r v t a
-    else match (norm_base r (fst v), snd v) with
-         | (BBranch b, []) =>                         (* dirty branch: `db/branch` is the branch's working set *)
-           match branch_working r b with
-           | Some w => match assoc t (d_schema w) with
-                       | Some cols => ans_eqb a (ARows cols (rows_of t (d_data w)))
-                       | None => is_error a
-                       end
-           | None => is_error a
-           end
-         | _ => match a with ARows _ _ | AHist _ _ => want_commit r v t a | _ => true end   (* refusing is fine; rows must be the right ones *)
-         end
-     if revdb_denotes r v then want_commit r v t a
-    else match (norm_base r (fst v), snd v) with
-         | (BBranch b, []) =>                         (* dirty branch: `db/branch` is the branch's working set *)
-           match branch_working r b with
-           | Some w => match assoc t (d_schema w) with
-                       | Some cols => ans_eqb a (ARows cols (rows_of t (d_data w)))
-                       | None => is_error a
-                       end
-           | None => is_error a
-           end
-         | _ => match a with ARows _ _ | AHist _ _ => want_commit r v t a | _ => true end   (* refusing is fine; rows must be the right ones *)
-         end
-a    if revdb_denotes r v then want_commit r v t a
-    else match (norm_base r (fst v), snd v) with
-         | (BBranch b, []) =>                         (* dirty branch: `db/branch` is the branch's working set *)
-           match branch_working r b with
-           | Some w => match assoc t (d_schema w) with
-                       | Some cols => ans_eqb a (ARows cols (rows_of t (d_data w)))
-                       | None => is_error a
-                       end
-           | None => is_error a
-           end
-         | _ => match a with ARows _ _ | AHist _ _ => want_commit r v t a | _ => true end   (* refusing is fine; rows must be the right ones *)
-         end
-     if revdb_denotes r v then want_commit r v t a
-    else match (norm_base r (fst v), snd v) with
-         | (BBranch b, []) =>                         (* dirty branch: `db/branch` is the branch's working set *)
-           match branch_working r b with
-           | Some w => match assoc t (d_schema w) with
-                       | Some cols => ans_eqb a (ARows cols (rows_of t (d_data w)))
-                       | None => is_error a
-                       end
-           | None => is_error a
-           end
-         | _ => match a with ARows _ _ | AHist _ _ => want_commit r v t a | _ => true end   (* refusing is fine; rows must be the right ones *)
-         end
-(    if revdb_denotes r v then want_commit r v t a
-    else match (norm_base r (fst v), snd v) with
-         | (BBranch b, []) =>                         (* dirty branch: `db/branch` is the branch's working set *)
-           match branch_working r b with
-           | Some w => match assoc t (d_schema w) with
-                       | Some cols => ans_eqb a (ARows cols (rows_of t (d_data w)))
-                       | None => is_error a
-                       end
-           | None => is_error a
-           end
-         | _ => match a with ARows _ _ | AHist _ _ => want_commit r v t a | _ => true end   (* refusing is fine; rows must be the right ones *)
-         end
-A    if revdb_denotes r v then want_commit r v t a
-    else match (norm_base r (fst v), snd v) with
-         | (BBranch b, []) =>                         (* dirty branch: `db/branch` is the branch's working set *)
-           match branch_working r b with
-           | Some w => match assoc t (d_schema w) with
-                       | Some cols => ans_eqb a (ARows cols (rows_of t (d_data w)))
-                       | None => is_error a
-                       end
-           | None => is_error a
-           end
-         | _ => match a with ARows _ _ | AHist _ _ => want_commit r v t a | _ => true end   (* refusing is fine; rows must be the right ones *)
-         end
-R    if revdb_denotes r v then want_commit r v t a
-    else match (norm_base r (fst v), snd v) with
-         | (BBranch b, []) =>                         (* dirty branch: `db/branch` is the branch's working set *)
-           match branch_working r b with
-           | Some w => match assoc t (d_schema w) with
-                       | Some cols => ans_eqb a (ARows cols (rows_of t (d_data w)))
-                       | None => is_error a
-                       end
-           | None => is_error a
-           end
-         | _ => match a with ARows _ _ | AHist _ _ => want_commit r v t a | _ => true end   (* refusing is fine; rows must be the right ones *)
-         end
-o    if revdb_denotes r v then want_commit r v t a
-    else match (norm_base r (fst v), snd v) with
-         | (BBranch b, []) =>                         (* dirty branch: `db/branch` is the branch's working set *)
-           match branch_working r b with
-           | Some w => match assoc t (d_schema w) with
-                       | Some cols => ans_eqb a (ARows cols (rows_of t (d_data w)))
-                       | None => is_error a
-                       end
-           | None => is_error a
-           end
-         | _ => match a with ARows _ _ | AHist _ _ => want_commit r v t a | _ => true end   (* refusing is fine; rows must be the right ones *)
-         end
-w    if revdb_denotes r v then want_commit r v t a
-    else match (norm_base r (fst v), snd v) with
-         | (BBranch b, []) =>                         (* dirty branch: `db/branch` is the branch's working set *)
-           match branch_working r b with
-           | Some w => match assoc t (d_schema w) with
-                       | Some cols => ans_eqb a (ARows cols (rows_of t (d_data w)))
-                       | None => is_error a
-                       end
-           | None => is_error a
-           end
-         | _ => match a with ARows _ _ | AHist _ _ => want_commit r v t a | _ => true end   (* refusing is fine; rows must be the right ones *)
-         end
-s    if revdb_denotes r v then want_commit r v t a
-    else match (norm_base r (fst v), snd v) with
-         | (BBranch b, []) =>                         (* dirty branch: `db/branch` is the branch's working set *)
-           match branch_working r b with
-           | Some w => match assoc t (d_schema w) with
-                       | Some cols => ans_eqb a (ARows cols (rows_of t (d_data w)))
-                       | None => is_error a
-                       end
-           | None => is_error a
-           end
-         | _ => match a with ARows _ _ | AHist _ _ => want_commit r v t a | _ => true end   (* refusing is fine; rows must be the right ones *)
-         end
-     if revdb_denotes r v then want_commit r v t a
-    else match (norm_base r (fst v), snd v) with
-         | (BBranch b, []) =>                         (* dirty branch: `db/branch` is the branch's working set *)
-           match branch_working r b with
-           | Some w => match assoc t (d_schema w) with
-                       | Some cols => ans_eqb a (ARows cols (rows_of t (d_data w)))
-                       | None => is_error a
-                       end
-           | None => is_error a
-           end
-         | _ => match a with ARows _ _ | AHist _ _ => want_commit r v t a | _ => true end   (* refusing is fine; rows must be the right ones *)
-         end
-t    if revdb_denotes r v then want_commit r v t a
-    else match (norm_base r (fst v), snd v) with
-         | (BBranch b, []) =>                         (* dirty branch: `db/branch` is the branch's working set *)
-           match branch_working r b with
-           | Some w => match assoc t (d_schema w) with
-                       | Some cols => ans_eqb a (ARows cols (rows_of t (d_data w)))
-                       | None => is_error a
-                       end
-           | None => is_error a
-           end
-         | _ => match a with ARows _ _ | AHist _ _ => want_commit r v t a | _ => true end   (* refusing is fine; rows must be the right ones *)
-         end
-g    if revdb_denotes r v then want_commit r v t a
-    else match (norm_base r (fst v), snd v) with
-         | (BBranch b, []) =>                         (* dirty branch: `db/branch` is the branch's working set *)
-           match branch_working r b with
-           | Some w => match assoc t (d_schema w) with
-                       | Some cols => ans_eqb a (ARows cols (rows_of t (d_data w)))
-                       | None => is_error a
-                       end
-           | None => is_error a
-           end
-         | _ => match a with ARows _ _ | AHist _ _ => want_commit r v t a | _ => true end   (* refusing is fine; rows must be the right ones *)
-         end
-t    if revdb_denotes r v then want_commit r v t a
-    else match (norm_base r (fst v), snd v) with
-         | (BBranch b, []) =>                         (* dirty branch: `db/branch` is the branch's working set *)
-           match branch_working r b with
-           | Some w => match assoc t (d_schema w) with
-                       | Some cols => ans_eqb a (ARows cols (rows_of t (d_data w)))
-                       | None => is_error a
-                       end
-           | None => is_error a
-           end
-         | _ => match a with ARows _ _ | AHist _ _ => want_commit r v t a | _ => true end   (* refusing is fine; rows must be the right ones *)
-         end
-     if revdb_denotes r v then want_commit r v t a
-    else match (norm_base r (fst v), snd v) with
-         | (BBranch b, []) =>                         (* dirty branch: `db/branch` is the branch's working set *)
-           match branch_working r b with
-           | Some w => match assoc t (d_schema w) with
-                       | Some cols => ans_eqb a (ARows cols (rows_of t (d_data w)))
-                       | None => is_error a
-                       end
-           | None => is_error a
-           end
-         | _ => match a with ARows _ _ | AHist _ _ => want_commit r v t a | _ => true end   (* refusing is fine; rows must be the right ones *)
-         end
-(    if revdb_denotes r v then want_commit r v t a
-    else match (norm_base r (fst v), snd v) with
-         | (BBranch b, []) =>                         (* dirty branch: `db/branch` is the branch's working set *)
-           match branch_working r b with
-           | Some w => match assoc t (d_schema w) with
-                       | Some cols => ans_eqb a (ARows cols (rows_of t (d_data w)))
-                       | None => is_error a
-                       end
-           | None => is_error a
-           end
-         | _ => match a with ARows _ _ | AHist _ _ => want_commit r v t a | _ => true end   (* refusing is fine; rows must be the right ones *)
-         end
-h    if revdb_denotes r v then want_commit r v t a
-    else match (norm_base r (fst v), snd v) with
-         | (BBranch b, []) =>                         (* dirty branch: `db/branch` is the branch's working set *)
-           match branch_working r b with
-           | Some w => match assoc t (d_schema w) with
-                       | Some cols => ans_eqb a (ARows cols (rows_of t (d_data w)))
-                       | None => is_error a
-                       end
-           | None => is_error a
-           end
-         | _ => match a with ARows _ _ | AHist _ _ => want_commit r v t a | _ => true end   (* refusing is fine; rows must be the right ones *)
-         end
-i    if revdb_denotes r v then want_commit r v t a
-    else match (norm_base r (fst v), snd v) with
-         | (BBranch b, []) =>                         (* dirty branch: `db/branch` is the branch's working set *)
-           match branch_working r b with
-           | Some w => match assoc t (d_schema w) with
-                       | Some cols => ans_eqb a (ARows cols (rows_of t (d_data w)))
-                       | None => is_error a
-                       end
-           | None => is_error a
-           end
-         | _ => match a with ARows _ _ | AHist _ _ => want_commit r v t a | _ => true end   (* refusing is fine; rows must be the right ones *)
-         end
-s    if revdb_denotes r v then want_commit r v t a
-    else match (norm_base r (fst v), snd v) with
-         | (BBranch b, []) =>                         (* dirty branch: `db/branch` is the branch's working set *)
-           match branch_working r b with
-           | Some w => match assoc t (d_schema w) with
-                       | Some cols => ans_eqb a (ARows cols (rows_of t (d_data w)))
-                       | None => is_error a
-                       end
-           | None => is_error a
-           end
-         | _ => match a with ARows _ _ | AHist _ _ => want_commit r v t a | _ => true end   (* refusing is fine; rows must be the right ones *)
-         end
-t    if revdb_denotes r v then want_commit r v t a
-    else match (norm_base r (fst v), snd v) with
-         | (BBranch b, []) =>                         (* dirty branch: `db/branch` is the branch's working set *)
-           match branch_working r b with
-           | Some w => match assoc t (d_schema w) with
-                       | Some cols => ans_eqb a (ARows cols (rows_of t (d_data w)))
-                       | None => is_error a
-                       end
-           | None => is_error a
-           end
-         | _ => match a with ARows _ _ | AHist _ _ => want_commit r v t a | _ => true end   (* refusing is fine; rows must be the right ones *)
-         end
-_    if revdb_denotes r v then want_commit r v t a
-    else match (norm_base r (fst v), snd v) with
-         | (BBranch b, []) =>                         (* dirty branch: `db/branch` is the branch's working set *)
-           match branch_working r b with
-           | Some w => match assoc t (d_schema w) with
-                       | Some cols => ans_eqb a (ARows cols (rows_of t (d_data w)))
-                       | None => is_error a
-                       end
-           | None => is_error a
-           end
-         | _ => match a with ARows _ _ | AHist _ _ => want_commit r v t a | _ => true end   (* refusing is fine; rows must be the right ones *)
-         end
-r    if revdb_denotes r v then want_commit r v t a
-    else match (norm_base r (fst v), snd v) with
-         | (BBranch b, []) =>                         (* dirty branch: `db/branch` is the branch's working set *)
-           match branch_working r b with
-           | Some w => match assoc t (d_schema w) with
-                       | Some cols => ans_eqb a (ARows cols (rows_of t (d_data w)))
-                       | None => is_error a
-                       end
-           | None => is_error a
-           end
-         | _ => match a with ARows _ _ | AHist _ _ => want_commit r v t a | _ => true end   (* refusing is fine; rows must be the right ones *)
-         end
-o    if revdb_denotes r v then want_commit r v t a
-    else match (norm_base r (fst v), snd v) with
-         | (BBranch b, []) =>                         (* dirty branch: `db/branch` is the branch's working set *)
-           match branch_working r b with
-           | Some w => match assoc t (d_schema w) with
-                       | Some cols => ans_eqb a (ARows cols (rows_of t (d_data w)))
-                       | None => is_error a
-                       end
-           | None => is_error a
-           end
-         | _ => match a with ARows _ _ | AHist _ _ => want_commit r v t a | _ => true end   (* refusing is fine; rows must be the right ones *)
-         end
-w    if revdb_denotes r v then want_commit r v t a
-    else match (norm_base r (fst v), snd v) with
-         | (BBranch b, []) =>                         (* dirty branch: `db/branch` is the branch's working set *)
-           match branch_working r b with
-           | Some w => match assoc t (d_schema w) with
-                       | Some cols => ans_eqb a (ARows cols (rows_of t (d_data w)))
-                       | None => is_error a
-                       end
-           | None => is_error a
-           end
-         | _ => match a with ARows _ _ | AHist _ _ => want_commit r v t a | _ => true end   (* refusing is fine; rows must be the right ones *)
-         end
-s    if revdb_denotes r v then want_commit r v t a
-    else match (norm_base r (fst v), snd v) with
-         | (BBranch b, []) =>                         (* dirty branch: `db/branch` is the branch's working set *)
-           match branch_working r b with
-           | Some w => match assoc t (d_schema w) with
-                       | Some cols => ans_eqb a (ARows cols (rows_of t (d_data w)))
-                       | None => is_error a
-                       end
-           | None => is_error a
-           end
-         | _ => match a with ARows _ _ | AHist _ _ => want_commit r v t a | _ => true end   (* refusing is fine; rows must be the right ones *)
-         end
-_    if revdb_denotes r v then want_commit r v t a
-    else match (norm_base r (fst v), snd v) with
-         | (BBranch b, []) =>                         (* dirty branch: `db/branch` is the branch's working set *)
-           match branch_working r b with
-           | Some w => match assoc t (d_schema w) with
-                       | Some cols => ans_eqb a (ARows cols (rows_of t (d_data w)))
-                       | None => is_error a
-                       end
-           | None => is_error a
-           end
-         | _ => match a with ARows _ _ | AHist _ _ => want_commit r v t a | _ => true end   (* refusing is fine; rows must be the right ones *)
-         end
-a    if revdb_denotes r v then want_commit r v t a
-    else match (norm_base r (fst v), snd v) with
-         | (BBranch b, []) =>                         (* dirty branch: `db/branch` is the branch's working set *)
-           match branch_working r b with
-           | Some w => match assoc t (d_schema w) with
-                       | Some cols => ans_eqb a (ARows cols (rows_of t (d_data w)))
-                       | None => is_error a
-                       end
-           | None => is_error a
-           end
-         | _ => match a with ARows _ _ | AHist _ _ => want_commit r v t a | _ => true end   (* refusing is fine; rows must be the right ones *)
-         end
-t    if revdb_denotes r v then want_commit r v t a
-    else match (norm_base r (fst v), snd v) with
-         | (BBranch b, []) =>                         (* dirty branch: `db/branch` is the branch's working set *)
-           match branch_working r b with
-           | Some w => match assoc t (d_schema w) with
-                       | Some cols => ans_eqb a (ARows cols (rows_of t (d_data w)))
-                       | None => is_error a
-                       end
-           | None => is_error a
-           end
-         | _ => match a with ARows _ _ | AHist _ _ => want_commit r v t a | _ => true end   (* refusing is fine; rows must be the right ones *)
-         end
-     if revdb_denotes r v then want_commit r v t a
-    else match (norm_base r (fst v), snd v) with
-         | (BBranch b, []) =>                         (* dirty branch: `db/branch` is the branch's working set *)
-           match branch_working r b with
-           | Some w => match assoc t (d_schema w) with
-                       | Some cols => ans_eqb a (ARows cols (rows_of t (d_data w)))
-                       | None => is_error a
-                       end
-           | None => is_error a
-           end
-         | _ => match a with ARows _ _ | AHist _ _ => want_commit r v t a | _ => true end   (* refusing is fine; rows must be the right ones *)
-         end
-(    if revdb_denotes r v then want_commit r v t a
-    else match (norm_base r (fst v), snd v) with
-         | (BBranch b, []) =>                         (* dirty branch: `db/branch` is the branch's working set *)
-           match branch_working r b with
-           | Some w => match assoc t (d_schema w) with
-                       | Some cols => ans_eqb a (ARows cols (rows_of t (d_data w)))
-                       | None => is_error a
-                       end
-           | None => is_error a
-           end
-         | _ => match a with ARows _ _ | AHist _ _ => want_commit r v t a | _ => true end   (* refusing is fine; rows must be the right ones *)
-         end
-r    if revdb_denotes r v then want_commit r v t a
-    else match (norm_base r (fst v), snd v) with
-         | (BBranch b, []) =>                         (* dirty branch: `db/branch` is the branch's working set *)
-           match branch_working r b with
-           | Some w => match assoc t (d_schema w) with
-                       | Some cols => ans_eqb a (ARows cols (rows_of t (d_data w)))
-                       | None => is_error a
-                       end
-           | None => is_error a
-           end
-         | _ => match a with ARows _ _ | AHist _ _ => want_commit r v t a | _ => true end   (* refusing is fine; rows must be the right ones *)
-         end
-_    if revdb_denotes r v then want_commit r v t a
-    else match (norm_base r (fst v), snd v) with
-         | (BBranch b, []) =>                         (* dirty branch: `db/branch` is the branch's working set *)
-           match branch_working r b with
-           | Some w => match assoc t (d_schema w) with
-                       | Some cols => ans_eqb a (ARows cols (rows_of t (d_data w)))
-                       | None => is_error a
-                       end
-           | None => is_error a
-           end
-         | _ => match a with ARows _ _ | AHist _ _ => want_commit r v t a | _ => true end   (* refusing is fine; rows must be the right ones *)
-         end
-h    if revdb_denotes r v then want_commit r v t a
-    else match (norm_base r (fst v), snd v) with
-         | (BBranch b, []) =>                         (* dirty branch: `db/branch` is the branch's working set *)
-           match branch_working r b with
-           | Some w => match assoc t (d_schema w) with
-                       | Some cols => ans_eqb a (ARows cols (rows_of t (d_data w)))
-                       | None => is_error a
-                       end
-           | None => is_error a
-           end
-         | _ => match a with ARows _ _ | AHist _ _ => want_commit r v t a | _ => true end   (* refusing is fine; rows must be the right ones *)
-         end
-i    if revdb_denotes r v then want_commit r v t a
-    else match (norm_base r (fst v), snd v) with
-         | (BBranch b, []) =>                         (* dirty branch: `db/branch` is the branch's working set *)
-           match branch_working r b with
-           | Some w => match assoc t (d_schema w) with
-                       | Some cols => ans_eqb a (ARows cols (rows_of t (d_data w)))
-                       | None => is_error a
-                       end
-           | None => is_error a
-           end
-         | _ => match a with ARows _ _ | AHist _ _ => want_commit r v t a | _ => true end   (* refusing is fine; rows must be the right ones *)
-         end
-s    if revdb_denotes r v then want_commit r v t a
-    else match (norm_base r (fst v), snd v) with
-         | (BBranch b, []) =>                         (* dirty branch: `db/branch` is the branch's working set *)
-           match branch_working r b with
-           | Some w => match assoc t (d_schema w) with
-                       | Some cols => ans_eqb a (ARows cols (rows_of t (d_data w)))
-                       | None => is_error a
-                       end
-           | None => is_error a
-           end
-         | _ => match a with ARows _ _ | AHist _ _ => want_commit r v t a | _ => true end   (* refusing is fine; rows must be the right ones *)
-         end
-t    if revdb_denotes r v then want_commit r v t a
-    else match (norm_base r (fst v), snd v) with
-         | (BBranch b, []) =>                         (* dirty branch: `db/branch` is the branch's working set *)
-           match branch_working r b with
-           | Some w => match assoc t (d_schema w) with
-                       | Some cols => ans_eqb a (ARows cols (rows_of t (d_data w)))
-                       | None => is_error a
-                       end
-           | None => is_error a
-           end
-         | _ => match a with ARows _ _ | AHist _ _ => want_commit r v t a | _ => true end   (* refusing is fine; rows must be the right ones *)
-         end
-     if revdb_denotes r v then want_commit r v t a
-    else match (norm_base r (fst v), snd v) with
-         | (BBranch b, []) =>                         (* dirty branch: `db/branch` is the branch's working set *)
-           match branch_working r b with
-           | Some w => match assoc t (d_schema w) with
-                       | Some cols => ans_eqb a (ARows cols (rows_of t (d_data w)))
-                       | None => is_error a
-                       end
-           | None => is_error a
-           end
-         | _ => match a with ARows _ _ | AHist _ _ => want_commit r v t a | _ => true end   (* refusing is fine; rows must be the right ones *)
-         end
-r    if revdb_denotes r v then want_commit r v t a
-    else match (norm_base r (fst v), snd v) with
-         | (BBranch b, []) =>                         (* dirty branch: `db/branch` is the branch's working set *)
-           match branch_working r b with
-           | Some w => match assoc t (d_schema w) with
-                       | Some cols => ans_eqb a (ARows cols (rows_of t (d_data w)))
-                       | None => is_error a
-                       end
-           | None => is_error a
-           end
-         | _ => match a with ARows _ _ | AHist _ _ => want_commit r v t a | _ => true end   (* refusing is fine; rows must be the right ones *)
-         end
-)    if revdb_denotes r v then want_commit r v t a
-    else match (norm_base r (fst v), snd v) with
-         | (BBranch b, []) =>                         (* dirty branch: `db/branch` is the branch's working set *)
-           match branch_working r b with
-           | Some w => match assoc t (d_schema w) with
-                       | Some cols => ans_eqb a (ARows cols (rows_of t (d_data w)))
-                       | None => is_error a
-                       end
-           | None => is_error a
-           end
-         | _ => match a with ARows _ _ | AHist _ _ => want_commit r v t a | _ => true end   (* refusing is fine; rows must be the right ones *)
-         end
-     if revdb_denotes r v then want_commit r v t a
-    else match (norm_base r (fst v), snd v) with
-         | (BBranch b, []) =>                         (* dirty branch: `db/branch` is the branch's working set *)
-           match branch_working r b with
-           | Some w => match assoc t (d_schema w) with
-                       | Some cols => ans_eqb a (ARows cols (rows_of t (d_data w)))
-                       | None => is_error a
-                       end
-           | None => is_error a
-           end
-         | _ => match a with ARows _ _ | AHist _ _ => want_commit r v t a | _ => true end   (* refusing is fine; rows must be the right ones *)
-         end
-t    if revdb_denotes r v then want_commit r v t a
-    else match (norm_base r (fst v), snd v) with
-         | (BBranch b, []) =>                         (* dirty branch: `db/branch` is the branch's working set *)
-           match branch_working r b with
-           | Some w => match assoc t (d_schema w) with
-                       | Some cols => ans_eqb a (ARows cols (rows_of t (d_data w)))
-                       | None => is_error a
-                       end
-           | None => is_error a
-           end
-         | _ => match a with ARows _ _ | AHist _ _ => want_commit r v t a | _ => true end   (* refusing is fine; rows must be the right ones *)
-         end
-g    if revdb_denotes r v then want_commit r v t a
-    else match (norm_base r (fst v), snd v) with
-         | (BBranch b, []) =>                         (* dirty branch: `db/branch` is the branch's working set *)
-           match branch_working r b with
-           | Some w => match assoc t (d_schema w) with
-                       | Some cols => ans_eqb a (ARows cols (rows_of t (d_data w)))
-                       | None => is_error a
-                       end
-           | None => is_error a
-           end
-         | _ => match a with ARows _ _ | AHist _ _ => want_commit r v t a | _ => true end   (* refusing is fine; rows must be the right ones *)
-         end
-t    if revdb_denotes r v then want_commit r v t a
-    else match (norm_base r (fst v), snd v) with
-         | (BBranch b, []) =>                         (* dirty branch: `db/branch` is the branch's working set *)
-           match branch_working r b with
-           | Some w => match assoc t (d_schema w) with
-                       | Some cols => ans_eqb a (ARows cols (rows_of t (d_data w)))
-                       | None => is_error a
-                       end
-           | None => is_error a
-           end
-         | _ => match a with ARows _ _ | AHist _ _ => want_commit r v t a | _ => true end   (* refusing is fine; rows must be the right ones *)
-         end
-     if revdb_denotes r v then want_commit r v t a
-    else match (norm_base r (fst v), snd v) with
-         | (BBranch b, []) =>                         (* dirty branch: `db/branch` is the branch's working set *)
-           match branch_working r b with
-           | Some w => match assoc t (d_schema w) with
-                       | Some cols => ans_eqb a (ARows cols (rows_of t (d_data w)))
-                       | None => is_error a
-                       end
-           | None => is_error a
-           end
-         | _ => match a with ARows _ _ | AHist _ _ => want_commit r v t a | _ => true end   (* refusing is fine; rows must be the right ones *)
-         end
-c    if revdb_denotes r v then want_commit r v t a
-    else match (norm_base r (fst v), snd v) with
-         | (BBranch b, []) =>                         (* dirty branch: `db/branch` is the branch's working set *)
-           match branch_working r b with
-           | Some w => match assoc t (d_schema w) with
-                       | Some cols => ans_eqb a (ARows cols (rows_of t (d_data w)))
-                       | None => is_error a
-                       end
-           | None => is_error a
-           end
-         | _ => match a with ARows _ _ | AHist _ _ => want_commit r v t a | _ => true end   (* refusing is fine; rows must be the right ones *)
-         end
-     if revdb_denotes r v then want_commit r v t a
-    else match (norm_base r (fst v), snd v) with
-         | (BBranch b, []) =>                         (* dirty branch: `db/branch` is the branch's working set *)
-           match branch_working r b with
-           | Some w => match assoc t (d_schema w) with
-                       | Some cols => ans_eqb a (ARows cols (rows_of t (d_data w)))
-                       | None => is_error a
-                       end
-           | None => is_error a
-           end
-         | _ => match a with ARows _ _ | AHist _ _ => want_commit r v t a | _ => true end   (* refusing is fine; rows must be the right ones *)
-         end
-t    if revdb_denotes r v then want_commit r v t a
-    else match (norm_base r (fst v), snd v) with
-         | (BBranch b, []) =>                         (* dirty branch: `db/branch` is the branch's working set *)
-           match branch_working r b with
-           | Some w => match assoc t (d_schema w) with
-                       | Some cols => ans_eqb a (ARows cols (rows_of t (d_data w)))
-                       | None => is_error a
-                       end
-           | None => is_error a
-           end
-         | _ => match a with ARows _ _ | AHist _ _ => want_commit r v t a | _ => true end   (* refusing is fine; rows must be the right ones *)
-         end
-)    if revdb_denotes r v then want_commit r v t a
-    else match (norm_base r (fst v), snd v) with
-         | (BBranch b, []) =>                         (* dirty branch: `db/branch` is the branch's working set *)
-           match branch_working r b with
-           | Some w => match assoc t (d_schema w) with
-                       | Some cols => ans_eqb a (ARows cols (rows_of t (d_data w)))
-                       | None => is_error a
-                       end
-           | None => is_error a
-           end
-         | _ => match a with ARows _ _ | AHist _ _ => want_commit r v t a | _ => true end   (* refusing is fine; rows must be the right ones *)
-         end
-)    if revdb_denotes r v then want_commit r v t a
-    else match (norm_base r (fst v), snd v) with
-         | (BBranch b, []) =>                         (* dirty branch: `db/branch` is the branch's working set *)
-           match branch_working r b with
-           | Some w => match assoc t (d_schema w) with
-                       | Some cols => ans_eqb a (ARows cols (rows_of t (d_data w)))
-                       | None => is_error a
-                       end
-           | None => is_error a
-           end
-         | _ => match a with ARows _ _ | AHist _ _ => want_commit r v t a | _ => true end   (* refusing is fine; rows must be the right ones *)
-         end
-
-    if revdb_denotes r v then want_commit r v t a
-    else match (norm_base r (fst v), snd v) with
-         | (BBranch b, []) =>                         (* dirty branch: `db/branch` is the branch's working set *)
-           match branch_working r b with
-           | Some w => match assoc t (d_schema w) with
-                       | Some cols => ans_eqb a (ARows cols (rows_of t (d_data w)))
-                       | None => is_error a
-                       end
-           | None => is_error a
-           end
-         | _ => match a with ARows _ _ | AHist _ _ => want_commit r v t a | _ => true end   (* refusing is fine; rows must be the right ones *)
-         end
-     if revdb_denotes r v then want_commit r v t a
-    else match (norm_base r (fst v), snd v) with
-         | (BBranch b, []) =>                         (* dirty branch: `db/branch` is the branch's working set *)
-           match branch_working r b with
-           | Some w => match assoc t (d_schema w) with
-                       | Some cols => ans_eqb a (ARows cols (rows_of t (d_data w)))
-                       | None => is_error a
-                       end
-           | None => is_error a
-           end
-         | _ => match a with ARows _ _ | AHist _ _ => want_commit r v t a | _ => true end   (* refusing is fine; rows must be the right ones *)
-         end
-     if revdb_denotes r v then want_commit r v t a
-    else match (norm_base r (fst v), snd v) with
-         | (BBranch b, []) =>                         (* dirty branch: `db/branch` is the branch's working set *)
-           match branch_working r b with
-           | Some w => match assoc t (d_schema w) with
-                       | Some cols => ans_eqb a (ARows cols (rows_of t (d_data w)))
-                       | None => is_error a
-                       end
-           | None => is_error a
-           end
-         | _ => match a with ARows _ _ | AHist _ _ => want_commit r v t a | _ => true end   (* refusing is fine; rows must be the right ones *)
-         end
-     if revdb_denotes r v then want_commit r v t a
-    else match (norm_base r (fst v), snd v) with
-         | (BBranch b, []) =>                         (* dirty branch: `db/branch` is the branch's working set *)
-           match branch_working r b with
-           | Some w => match assoc t (d_schema w) with
-                       | Some cols => ans_eqb a (ARows cols (rows_of t (d_data w)))
-                       | None => is_error a
-                       end
-           | None => is_error a
-           end
-         | _ => match a with ARows _ _ | AHist _ _ => want_commit r v t a | _ => true end   (* refusing is fine; rows must be the right ones *)
-         end
-     if revdb_denotes r v then want_commit r v t a
-    else match (norm_base r (fst v), snd v) with
-         | (BBranch b, []) =>                         (* dirty branch: `db/branch` is the branch's working set *)
-           match branch_working r b with
-           | Some w => match assoc t (d_schema w) with
-                       | Some cols => ans_eqb a (ARows cols (rows_of t (d_data w)))
-                       | None => is_error a
-                       end
-           | None => is_error a
-           end
-         | _ => match a with ARows _ _ | AHist _ _ => want_commit r v t a | _ => true end   (* refusing is fine; rows must be the right ones *)
-         end
-|    if revdb_denotes r v then want_commit r v t a
-    else match (norm_base r (fst v), snd v) with
-         | (BBranch b, []) =>                         (* dirty branch: `db/branch` is the branch's working set *)
-           match branch_working r b with
-           | Some w => match assoc t (d_schema w) with
-                       | Some cols => ans_eqb a (ARows cols (rows_of t (d_data w)))
-                       | None => is_error a
-                       end
-           | None => is_error a
-           end
-         | _ => match a with ARows _ _ | AHist _ _ => want_commit r v t a | _ => true end   (* refusing is fine; rows must be the right ones *)
-         end
-     if revdb_denotes r v then want_commit r v t a
-    else match (norm_base r (fst v), snd v) with
-         | (BBranch b, []) =>                         (* dirty branch: `db/branch` is the branch's working set *)
-           match branch_working r b with
-           | Some w => match assoc t (d_schema w) with
-                       | Some cols => ans_eqb a (ARows cols (rows_of t (d_data w)))
-                       | None => is_error a
-                       end
-           | None => is_error a
-           end
-         | _ => match a with ARows _ _ | AHist _ _ => want_commit r v t a | _ => true end   (* refusing is fine; rows must be the right ones *)
-         end
-N    if revdb_denotes r v then want_commit r v t a
-    else match (norm_base r (fst v), snd v) with
-         | (BBranch b, []) =>                         (* dirty branch: `db/branch` is the branch's working set *)
-           match branch_working r b with
-           | Some w => match assoc t (d_schema w) with
-                       | Some cols => ans_eqb a (ARows cols (rows_of t (d_data w)))
-                       | None => is_error a
-                       end
-           | None => is_error a
-           end
-         | _ => match a with ARows _ _ | AHist _ _ => want_commit r v t a | _ => true end   (* refusing is fine; rows must be the right ones *)
-         end
-o    if revdb_denotes r v then want_commit r v t a
-    else match (norm_base r (fst v), snd v) with
-         | (BBranch b, []) =>                         (* dirty branch: `db/branch` is the branch's working set *)
-           match branch_working r b with
-           | Some w => match assoc t (d_schema w) with
-                       | Some cols => ans_eqb a (ARows cols (rows_of t (d_data w)))
-                       | None => is_error a
-                       end
-           | None => is_error a
-           end
-         | _ => match a with ARows _ _ | AHist _ _ => want_commit r v t a | _ => true end   (* refusing is fine; rows must be the right ones *)
-         end
-n    if revdb_denotes r v then want_commit r v t a
-    else match (norm_base r (fst v), snd v) with
-         | (BBranch b, []) =>                         (* dirty branch: `db/branch` is the branch's working set *)
-           match branch_working r b with
-           | Some w => match assoc t (d_schema w) with
-                       | Some cols => ans_eqb a (ARows cols (rows_of t (d_data w)))
-                       | None => is_error a
-                       end
-           | None => is_error a
-           end
-         | _ => match a with ARows _ _ | AHist _ _ => want_commit r v t a | _ => true end   (* refusing is fine; rows must be the right ones *)
-         end
-e    if revdb_denotes r v then want_commit r v t a
-    else match (norm_base r (fst v), snd v) with
-         | (BBranch b, []) =>                         (* dirty branch: `db/branch` is the branch's working set *)
-           match branch_working r b with
-           | Some w => match assoc t (d_schema w) with
-                       | Some cols => ans_eqb a (ARows cols (rows_of t (d_data w)))
-                       | None => is_error a
-                       end
-           | None => is_error a
-           end
-         | _ => match a with ARows _ _ | AHist _ _ => want_commit r v t a | _ => true end   (* refusing is fine; rows must be the right ones *)
-         end
-     if revdb_denotes r v then want_commit r v t a
-    else match (norm_base r (fst v), snd v) with
-         | (BBranch b, []) =>                         (* dirty branch: `db/branch` is the branch's working set *)
-           match branch_working r b with
-           | Some w => match assoc t (d_schema w) with
-                       | Some cols => ans_eqb a (ARows cols (rows_of t (d_data w)))
-                       | None => is_error a
-                       end
-           | None => is_error a
-           end
-         | _ => match a with ARows _ _ | AHist _ _ => want_commit r v t a | _ => true end   (* refusing is fine; rows must be the right ones *)
-         end
-=    if revdb_denotes r v then want_commit r v t a
-    else match (norm_base r (fst v), snd v) with
-         | (BBranch b, []) =>                         (* dirty branch: `db/branch` is the branch's working set *)
-           match branch_working r b with
-           | Some w => match assoc t (d_schema w) with
-                       | Some cols => ans_eqb a (ARows cols (rows_of t (d_data w)))
-                       | None => is_error a
-                       end
-           | None => is_error a
-           end
-         | _ => match a with ARows _ _ | AHist _ _ => want_commit r v t a | _ => true end   (* refusing is fine; rows must be the right ones *)
-         end
->    if revdb_denotes r v then want_commit r v t a
-    else match (norm_base r (fst v), snd v) with
-         | (BBranch b, []) =>                         (* dirty branch: `db/branch` is the branch's working set *)
-           match branch_working r b with
-           | Some w => match assoc t (d_schema w) with
-                       | Some cols => ans_eqb a (ARows cols (rows_of t (d_data w)))
-                       | None => is_error a
-                       end
-           | None => is_error a
-           end
-         | _ => match a with ARows _ _ | AHist _ _ => want_commit r v t a | _ => true end   (* refusing is fine; rows must be the right ones *)
-         end
-     if revdb_denotes r v then want_commit r v t a
-    else match (norm_base r (fst v), snd v) with
-         | (BBranch b, []) =>                         (* dirty branch: `db/branch` is the branch's working set *)
-           match branch_working r b with
-           | Some w => match assoc t (d_schema w) with
-                       | Some cols => ans_eqb a (ARows cols (rows_of t (d_data w)))
-                       | None => is_error a
-                       end
-           | None => is_error a
-           end
-         | _ => match a with ARows _ _ | AHist _ _ => want_commit r v t a | _ => true end   (* refusing is fine; rows must be the right ones *)
-         end
-i    if revdb_denotes r v then want_commit r v t a
-    else match (norm_base r (fst v), snd v) with
-         | (BBranch b, []) =>                         (* dirty branch: `db/branch` is the branch's working set *)
-           match branch_working r b with
-           | Some w => match assoc t (d_schema w) with
-                       | Some cols => ans_eqb a (ARows cols (rows_of t (d_data w)))
-                       | None => is_error a
-                       end
-           | None => is_error a
-           end
-         | _ => match a with ARows _ _ | AHist _ _ => want_commit r v t a | _ => true end   (* refusing is fine; rows must be the right ones *)
-         end
-s    if revdb_denotes r v then want_commit r v t a
-    else match (norm_base r (fst v), snd v) with
-         | (BBranch b, []) =>                         (* dirty branch: `db/branch` is the branch's working set *)
-           match branch_working r b with
-           | Some w => match assoc t (d_schema w) with
-                       | Some cols => ans_eqb a (ARows cols (rows_of t (d_data w)))
-                       | None => is_error a
-                       end
-           | None => is_error a
-           end
-         | _ => match a with ARows _ _ | AHist _ _ => want_commit r v t a | _ => true end   (* refusing is fine; rows must be the right ones *)
-         end
-_    if revdb_denotes r v then want_commit r v t a
-    else match (norm_base r (fst v), snd v) with
-         | (BBranch b, []) =>                         (* dirty branch: `db/branch` is the branch's working set *)
-           match branch_working r b with
-           | Some w => match assoc t (d_schema w) with
-                       | Some cols => ans_eqb a (ARows cols (rows_of t (d_data w)))
-                       | None => is_error a
-                       end
-           | None => is_error a
-           end
-         | _ => match a with ARows _ _ | AHist _ _ => want_commit r v t a | _ => true end   (* refusing is fine; rows must be the right ones *)
-         end
-e    if revdb_denotes r v then want_commit r v t a
-    else match (norm_base r (fst v), snd v) with
-         | (BBranch b, []) =>                         (* dirty branch: `db/branch` is the branch's working set *)
-           match branch_working r b with
-           | Some w => match assoc t (d_schema w) with
-                       | Some cols => ans_eqb a (ARows cols (rows_of t (d_data w)))
-                       | None => is_error a
-                       end
-           | None => is_error a
-           end
-         | _ => match a with ARows _ _ | AHist _ _ => want_commit r v t a | _ => true end   (* refusing is fine; rows must be the right ones *)
-         end
-r    if revdb_denotes r v then want_commit r v t a
-    else match (norm_base r (fst v), snd v) with
-         | (BBranch b, []) =>                         (* dirty branch: `db/branch` is the branch's working set *)
-           match branch_working r b with
-           | Some w => match assoc t (d_schema w) with
-                       | Some cols => ans_eqb a (ARows cols (rows_of t (d_data w)))
-                       | None => is_error a
-                       end
-           | None => is_error a
-           end
-         | _ => match a with ARows _ _ | AHist _ _ => want_commit r v t a | _ => true end   (* refusing is fine; rows must be the right ones *)
-         end
-r    if revdb_denotes r v then want_commit r v t a
-    else match (norm_base r (fst v), snd v) with
-         | (BBranch b, []) =>                         (* dirty branch: `db/branch` is the branch's working set *)
-           match branch_working r b with
-           | Some w => match assoc t (d_schema w) with
-                       | Some cols => ans_eqb a (ARows cols (rows_of t (d_data w)))
-                       | None => is_error a
-                       end
-           | None => is_error a
-           end
-         | _ => match a with ARows _ _ | AHist _ _ => want_commit r v t a | _ => true end   (* refusing is fine; rows must be the right ones *)
-         end
-o    if revdb_denotes r v then want_commit r v t a
-    else match (norm_base r (fst v), snd v) with
-         | (BBranch b, []) =>                         (* dirty branch: `db/branch` is the branch's working set *)
-           match branch_working r b with
-           | Some w => match assoc t (d_schema w) with
-                       | Some cols => ans_eqb a (ARows cols (rows_of t (d_data w)))
-                       | None => is_error a
-                       end
-           | None => is_error a
-           end
-         | _ => match a with ARows _ _ | AHist _ _ => want_commit r v t a | _ => true end   (* refusing is fine; rows must be the right ones *)
-         end
-r    if revdb_denotes r v then want_commit r v t a
-    else match (norm_base r (fst v), snd v) with
-         | (BBranch b, []) =>                         (* dirty branch: `db/branch` is the branch's working set *)
-           match branch_working r b with
-           | Some w => match assoc t (d_schema w) with
-                       | Some cols => ans_eqb a (ARows cols (rows_of t (d_data w)))
-                       | None => is_error a
-                       end
-           | None => is_error a
-           end
-         | _ => match a with ARows _ _ | AHist _ _ => want_commit r v t a | _ => true end   (* refusing is fine; rows must be the right ones *)
-         end
-     if revdb_denotes r v then want_commit r v t a
-    else match (norm_base r (fst v), snd v) with
-         | (BBranch b, []) =>                         (* dirty branch: `db/branch` is the branch's working set *)
-           match branch_working r b with
-           | Some w => match assoc t (d_schema w) with
-                       | Some cols => ans_eqb a (ARows cols (rows_of t (d_data w)))
-                       | None => is_error a
-                       end
-           | None => is_error a
-           end
-         | _ => match a with ARows _ _ | AHist _ _ => want_commit r v t a | _ => true end   (* refusing is fine; rows must be the right ones *)
-         end
-a    if revdb_denotes r v then want_commit r v t a
-    else match (norm_base r (fst v), snd v) with
-         | (BBranch b, []) =>                         (* dirty branch: `db/branch` is the branch's working set *)
-           match branch_working r b with
-           | Some w => match assoc t (d_schema w) with
-                       | Some cols => ans_eqb a (ARows cols (rows_of t (d_data w)))
-                       | None => is_error a
-                       end
-           | None => is_error a
-           end
-         | _ => match a with ARows _ _ | AHist _ _ => want_commit r v t a | _ => true end   (* refusing is fine; rows must be the right ones *)
-         end
-
-    if revdb_denotes r v then want_commit r v t a
-    else match (norm_base r (fst v), snd v) with
-         | (BBranch b, []) =>                         (* dirty branch: `db/branch` is the branch's working set *)
-           match branch_working r b with
-           | Some w => match assoc t (d_schema w) with
-                       | Some cols => ans_eqb a (ARows cols (rows_of t (d_data w)))
-                       | None => is_error a
-                       end
-           | None => is_error a
-           end
-         | _ => match a with ARows _ _ | AHist _ _ => want_commit r v t a | _ => true end   (* refusing is fine; rows must be the right ones *)
-         end
-     if revdb_denotes r v then want_commit r v t a
-    else match (norm_base r (fst v), snd v) with
-         | (BBranch b, []) =>                         (* dirty branch: `db/branch` is the branch's working set *)
-           match branch_working r b with
-           | Some w => match assoc t (d_schema w) with
-                       | Some cols => ans_eqb a (ARows cols (rows_of t (d_data w)))
-                       | None => is_error a
-                       end
-           | None => is_error a
-           end
-         | _ => match a with ARows _ _ | AHist _ _ => want_commit r v t a | _ => true end   (* refusing is fine; rows must be the right ones *)
-         end
-     if revdb_denotes r v then want_commit r v t a
-    else match (norm_base r (fst v), snd v) with
-         | (BBranch b, []) =>                         (* dirty branch: `db/branch` is the branch's working set *)
-           match branch_working r b with
-           | Some w => match assoc t (d_schema w) with
-                       | Some cols => ans_eqb a (ARows cols (rows_of t (d_data w)))
-                       | None => is_error a
-                       end
-           | None => is_error a
-           end
-         | _ => match a with ARows _ _ | AHist _ _ => want_commit r v t a | _ => true end   (* refusing is fine; rows must be the right ones *)
-         end
-     if revdb_denotes r v then want_commit r v t a
-    else match (norm_base r (fst v), snd v) with
-         | (BBranch b, []) =>                         (* dirty branch: `db/branch` is the branch's working set *)
-           match branch_working r b with
-           | Some w => match assoc t (d_schema w) with
-                       | Some cols => ans_eqb a (ARows cols (rows_of t (d_data w)))
-                       | None => is_error a
-                       end
-           | None => is_error a
-           end
-         | _ => match a with ARows _ _ | AHist _ _ => want_commit r v t a | _ => true end   (* refusing is fine; rows must be the right ones *)
-         end
-     if revdb_denotes r v then want_commit r v t a
-    else match (norm_base r (fst v), snd v) with
-         | (BBranch b, []) =>                         (* dirty branch: `db/branch` is the branch's working set *)
-           match branch_working r b with
-           | Some w => match assoc t (d_schema w) with
-                       | Some cols => ans_eqb a (ARows cols (rows_of t (d_data w)))
-                       | None => is_error a
-                       end
-           | None => is_error a
-           end
-         | _ => match a with ARows _ _ | AHist _ _ => want_commit r v t a | _ => true end   (* refusing is fine; rows must be the right ones *)
-         end
-e    if revdb_denotes r v then want_commit r v t a
-    else match (norm_base r (fst v), snd v) with
-         | (BBranch b, []) =>                         (* dirty branch: `db/branch` is the branch's working set *)
-           match branch_working r b with
-           | Some w => match assoc t (d_schema w) with
-                       | Some cols => ans_eqb a (ARows cols (rows_of t (d_data w)))
-                       | None => is_error a
-                       end
-           | None => is_error a
-           end
-         | _ => match a with ARows _ _ | AHist _ _ => want_commit r v t a | _ => true end   (* refusing is fine; rows must be the right ones *)
-         end
-n    if revdb_denotes r v then want_commit r v t a
-    else match (norm_base r (fst v), snd v) with
-         | (BBranch b, []) =>                         (* dirty branch: `db/branch` is the branch's working set *)
-           match branch_working r b with
-           | Some w => match assoc t (d_schema w) with
-                       | Some cols => ans_eqb a (ARows cols (rows_of t (d_data w)))
-                       | None => is_error a
-                       end
-           | None => is_error a
-           end
-         | _ => match a with ARows _ _ | AHist _ _ => want_commit r v t a | _ => true end   (* refusing is fine; rows must be the right ones *)
-         end
-d    if revdb_denotes r v then want_commit r v t a
-    else match (norm_base r (fst v), snd v) with
-         | (BBranch b, []) =>                         (* dirty branch: `db/branch` is the branch's working set *)
-           match branch_working r b with
-           | Some w => match assoc t (d_schema w) with
-                       | Some cols => ans_eqb a (ARows cols (rows_of t (d_data w)))
-                       | None => is_error a
-                       end
-           | None => is_error a
-           end
-         | _ => match a with ARows _ _ | AHist _ _ => want_commit r v t a | _ => true end   (* refusing is fine; rows must be the right ones *)
-         end
-
-    if revdb_denotes r v then want_commit r v t a
-    else match (norm_base r (fst v), snd v) with
-         | (BBranch b, []) =>                         (* dirty branch: `db/branch` is the branch's working set *)
-           match branch_working r b with
-           | Some w => match assoc t (d_schema w) with
-                       | Some cols => ans_eqb a (ARows cols (rows_of t (d_data w)))
-                       | None => is_error a
-                       end
-           | None => is_error a
-           end
-         | _ => match a with ARows _ _ | AHist _ _ => want_commit r v t a | _ => true end   (* refusing is fine; rows must be the right ones *)
-         end
-     if revdb_denotes r v then want_commit r v t a
-    else match (norm_base r (fst v), snd v) with
-         | (BBranch b, []) =>                         (* dirty branch: `db/branch` is the branch's working set *)
-           match branch_working r b with
-           | Some w => match assoc t (d_schema w) with
-                       | Some cols => ans_eqb a (ARows cols (rows_of t (d_data w)))
-                       | None => is_error a
-                       end
-           | None => is_error a
-           end
-         | _ => match a with ARows _ _ | AHist _ _ => want_commit r v t a | _ => true end   (* refusing is fine; rows must be the right ones *)
-         end
-     if revdb_denotes r v then want_commit r v t a
-    else match (norm_base r (fst v), snd v) with
-         | (BBranch b, []) =>                         (* dirty branch: `db/branch` is the branch's working set *)
-           match branch_working r b with
-           | Some w => match assoc t (d_schema w) with
-                       | Some cols => ans_eqb a (ARows cols (rows_of t (d_data w)))
-                       | None => is_error a
-                       end
-           | None => is_error a
-           end
-         | _ => match a with ARows _ _ | AHist _ _ => want_commit r v t a | _ => true end   (* refusing is fine; rows must be the right ones *)
-         end
-|    if revdb_denotes r v then want_commit r v t a
-    else match (norm_base r (fst v), snd v) with
-         | (BBranch b, []) =>                         (* dirty branch: `db/branch` is the branch's working set *)
-           match branch_working r b with
-           | Some w => match assoc t (d_schema w) with
-                       | Some cols => ans_eqb a (ARows cols (rows_of t (d_data w)))
-                       | None => is_error a
-                       end
-           | None => is_error a
-           end
-         | _ => match a with ARows _ _ | AHist _ _ => want_commit r v t a | _ => true end   (* refusing is fine; rows must be the right ones *)
-         end
-     if revdb_denotes r v then want_commit r v t a
-    else match (norm_base r (fst v), snd v) with
-         | (BBranch b, []) =>                         (* dirty branch: `db/branch` is the branch's working set *)
-           match branch_working r b with
-           | Some w => match assoc t (d_schema w) with
-                       | Some cols => ans_eqb a (ARows cols (rows_of t (d_data w)))
-                       | None => is_error a
-                       end
-           | None => is_error a
-           end
-         | _ => match a with ARows _ _ | AHist _ _ => want_commit r v t a | _ => true end   (* refusing is fine; rows must be the right ones *)
-         end
-Q    if revdb_denotes r v then want_commit r v t a
-    else match (norm_base r (fst v), snd v) with
-         | (BBranch b, []) =>                         (* dirty branch: `db/branch` is the branch's working set *)
-           match branch_working r b with
-           | Some w => match assoc t (d_schema w) with
-                       | Some cols => ans_eqb a (ARows cols (rows_of t (d_data w)))
-                       | None => is_error a
-                       end
-           | None => is_error a
-           end
-         | _ => match a with ARows _ _ | AHist _ _ => want_commit r v t a | _ => true end   (* refusing is fine; rows must be the right ones *)
-         end
-H    if revdb_denotes r v then want_commit r v t a
-    else match (norm_base r (fst v), snd v) with
-         | (BBranch b, []) =>                         (* dirty branch: `db/branch` is the branch's working set *)
-           match branch_working r b with
-           | Some w => match assoc t (d_schema w) with
-                       | Some cols => ans_eqb a (ARows cols (rows_of t (d_data w)))
-                       | None => is_error a
-                       end
-           | None => is_error a
-           end
-         | _ => match a with ARows _ _ | AHist _ _ => want_commit r v t a | _ => true end   (* refusing is fine; rows must be the right ones *)
-         end
-i    if revdb_denotes r v then want_commit r v t a
-    else match (norm_base r (fst v), snd v) with
-         | (BBranch b, []) =>                         (* dirty branch: `db/branch` is the branch's working set *)
-           match branch_working r b with
-           | Some w => match assoc t (d_schema w) with
-                       | Some cols => ans_eqb a (ARows cols (rows_of t (d_data w)))
-                       | None => is_error a
-                       end
-           | None => is_error a
-           end
-         | _ => match a with ARows _ _ | AHist _ _ => want_commit r v t a | _ => true end   (* refusing is fine; rows must be the right ones *)
-         end
-s    if revdb_denotes r v then want_commit r v t a
-    else match (norm_base r (fst v), snd v) with
-         | (BBranch b, []) =>                         (* dirty branch: `db/branch` is the branch's working set *)
-           match branch_working r b with
-           | Some w => match assoc t (d_schema w) with
-                       | Some cols => ans_eqb a (ARows cols (rows_of t (d_data w)))
-                       | None => is_error a
-                       end
-           | None => is_error a
-           end
-         | _ => match a with ARows _ _ | AHist _ _ => want_commit r v t a | _ => true end   (* refusing is fine; rows must be the right ones *)
-         end
-t    if revdb_denotes r v then want_commit r v t a
-    else match (norm_base r (fst v), snd v) with
-         | (BBranch b, []) =>                         (* dirty branch: `db/branch` is the branch's working set *)
-           match branch_working r b with
-           | Some w => match assoc t (d_schema w) with
-                       | Some cols => ans_eqb a (ARows cols (rows_of t (d_data w)))
-                       | None => is_error a
-                       end
-           | None => is_error a
-           end
-         | _ => match a with ARows _ _ | AHist _ _ => want_commit r v t a | _ => true end   (* refusing is fine; rows must be the right ones *)
-         end
-A    if revdb_denotes r v then want_commit r v t a
-    else match (norm_base r (fst v), snd v) with
-         | (BBranch b, []) =>                         (* dirty branch: `db/branch` is the branch's working set *)
-           match branch_working r b with
-           | Some w => match assoc t (d_schema w) with
-                       | Some cols => ans_eqb a (ARows cols (rows_of t (d_data w)))
-                       | None => is_error a
-                       end
-           | None => is_error a
-           end
-         | _ => match a with ARows _ _ | AHist _ _ => want_commit r v t a | _ => true end   (* refusing is fine; rows must be the right ones *)
-         end
-l    if revdb_denotes r v then want_commit r v t a
-    else match (norm_base r (fst v), snd v) with
-         | (BBranch b, []) =>                         (* dirty branch: `db/branch` is the branch's working set *)
-           match branch_working r b with
-           | Some w => match assoc t (d_schema w) with
-                       | Some cols => ans_eqb a (ARows cols (rows_of t (d_data w)))
-                       | None => is_error a
-                       end
-           | None => is_error a
-           end
-         | _ => match a with ARows _ _ | AHist _ _ => want_commit r v t a | _ => true end   (* refusing is fine; rows must be the right ones *)
-         end
-l    if revdb_denotes r v then want_commit r v t a
-    else match (norm_base r (fst v), snd v) with
-         | (BBranch b, []) =>                         (* dirty branch: `db/branch` is the branch's working set *)
-           match branch_working r b with
-           | Some w => match assoc t (d_schema w) with
-                       | Some cols => ans_eqb a (ARows cols (rows_of t (d_data w)))
-                       | None => is_error a
-                       end
-           | None => is_error a
-           end
-         | _ => match a with ARows _ _ | AHist _ _ => want_commit r v t a | _ => true end   (* refusing is fine; rows must be the right ones *)
-         end
-     if revdb_denotes r v then want_commit r v t a
-    else match (norm_base r (fst v), snd v) with
-         | (BBranch b, []) =>                         (* dirty branch: `db/branch` is the branch's working set *)
-           match branch_working r b with
-           | Some w => match assoc t (d_schema w) with
-                       | Some cols => ans_eqb a (ARows cols (rows_of t (d_data w)))
-                       | None => is_error a
-                       end
-           | None => is_error a
-           end
-         | _ => match a with ARows _ _ | AHist _ _ => want_commit r v t a | _ => true end   (* refusing is fine; rows must be the right ones *)
-         end
-t    if revdb_denotes r v then want_commit r v t a
-    else match (norm_base r (fst v), snd v) with
-         | (BBranch b, []) =>                         (* dirty branch: `db/branch` is the branch's working set *)
-           match branch_working r b with
-           | Some w => match assoc t (d_schema w) with
-                       | Some cols => ans_eqb a (ARows cols (rows_of t (d_data w)))
-                       | None => is_error a
-                       end
-           | None => is_error a
-           end
-         | _ => match a with ARows _ _ | AHist _ _ => want_commit r v t a | _ => true end   (* refusing is fine; rows must be the right ones *)
-         end
-     if revdb_denotes r v then want_commit r v t a
-    else match (norm_base r (fst v), snd v) with
-         | (BBranch b, []) =>                         (* dirty branch: `db/branch` is the branch's working set *)
-           match branch_working r b with
-           | Some w => match assoc t (d_schema w) with
-                       | Some cols => ans_eqb a (ARows cols (rows_of t (d_data w)))
-                       | None => is_error a
-                       end
-           | None => is_error a
-           end
-         | _ => match a with ARows _ _ | AHist _ _ => want_commit r v t a | _ => true end   (* refusing is fine; rows must be the right ones *)
-         end
-=    if revdb_denotes r v then want_commit r v t a
-    else match (norm_base r (fst v), snd v) with
-         | (BBranch b, []) =>                         (* dirty branch: `db/branch` is the branch's working set *)
-           match branch_working r b with
-           | Some w => match assoc t (d_schema w) with
-                       | Some cols => ans_eqb a (ARows cols (rows_of t (d_data w)))
-                       | None => is_error a
-                       end
-           | None => is_error a
-           end
-         | _ => match a with ARows _ _ | AHist _ _ => want_commit r v t a | _ => true end   (* refusing is fine; rows must be the right ones *)
-         end
->    if revdb_denotes r v then want_commit r v t a
-    else match (norm_base r (fst v), snd v) with
-         | (BBranch b, []) =>                         (* dirty branch: `db/branch` is the branch's working set *)
-           match branch_working r b with
-           | Some w => match assoc t (d_schema w) with
-                       | Some cols => ans_eqb a (ARows cols (rows_of t (d_data w)))
-                       | None => is_error a
-                       end
-           | None => is_error a
-           end
-         | _ => match a with ARows _ _ | AHist _ _ => want_commit r v t a | _ => true end   (* refusing is fine; rows must be the right ones *)
-         end
-
-    if revdb_denotes r v then want_commit r v t a
-    else match (norm_base r (fst v), snd v) with
-         | (BBranch b, []) =>                         (* dirty branch: `db/branch` is the branch's working set *)
-           match branch_working r b with
-           | Some w => match assoc t (d_schema w) with
-                       | Some cols => ans_eqb a (ARows cols (rows_of t (d_data w)))
-                       | None => is_error a
-                       end
-           | None => is_error a
-           end
-         | _ => match a with ARows _ _ | AHist _ _ => want_commit r v t a | _ => true end   (* refusing is fine; rows must be the right ones *)
-         end
-     if revdb_denotes r v then want_commit r v t a
-    else match (norm_base r (fst v), snd v) with
-         | (BBranch b, []) =>                         (* dirty branch: `db/branch` is the branch's working set *)
-           match branch_working r b with
-           | Some w => match assoc t (d_schema w) with
-                       | Some cols => ans_eqb a (ARows cols (rows_of t (d_data w)))
-                       | None => is_error a
-                       end
-           | None => is_error a
-           end
-         | _ => match a with ARows _ _ | AHist _ _ => want_commit r v t a | _ => true end   (* refusing is fine; rows must be the right ones *)
-         end
-     if revdb_denotes r v then want_commit r v t a
-    else match (norm_base r (fst v), snd v) with
-         | (BBranch b, []) =>                         (* dirty branch: `db/branch` is the branch's working set *)
-           match branch_working r b with
-           | Some w => match assoc t (d_schema w) with
-                       | Some cols => ans_eqb a (ARows cols (rows_of t (d_data w)))
-                       | None => is_error a
-                       end
-           | None => is_error a
-           end
-         | _ => match a with ARows _ _ | AHist _ _ => want_commit r v t a | _ => true end   (* refusing is fine; rows must be the right ones *)
-         end
-     if revdb_denotes r v then want_commit r v t a
-    else match (norm_base r (fst v), snd v) with
-         | (BBranch b, []) =>                         (* dirty branch: `db/branch` is the branch's working set *)
-           match branch_working r b with
-           | Some w => match assoc t (d_schema w) with
-                       | Some cols => ans_eqb a (ARows cols (rows_of t (d_data w)))
-                       | None => is_error a
-                       end
-           | None => is_error a
-           end
-         | _ => match a with ARows _ _ | AHist _ _ => want_commit r v t a | _ => true end   (* refusing is fine; rows must be the right ones *)
-         end
-     if revdb_denotes r v then want_commit r v t a
-    else match (norm_base r (fst v), snd v) with
-         | (BBranch b, []) =>                         (* dirty branch: `db/branch` is the branch's working set *)
-           match branch_working r b with
-           | Some w => match assoc t (d_schema w) with
-                       | Some cols => ans_eqb a (ARows cols (rows_of t (d_data w)))
-                       | None => is_error a
-                       end
-           | None => is_error a
-           end
-         | _ => match a with ARows _ _ | AHist _ _ => want_commit r v t a | _ => true end   (* refusing is fine; rows must be the right ones *)
-         end
-m    if revdb_denotes r v then want_commit r v t a
-    else match (norm_base r (fst v), snd v) with
-         | (BBranch b, []) =>                         (* dirty branch: `db/branch` is the branch's working set *)
-           match branch_working r b with
-           | Some w => match assoc t (d_schema w) with
-                       | Some cols => ans_eqb a (ARows cols (rows_of t (d_data w)))
-                       | None => is_error a
-                       end
-           | None => is_error a
-           end
-         | _ => match a with ARows _ _ | AHist _ _ => want_commit r v t a | _ => true end   (* refusing is fine; rows must be the right ones *)
-         end
-a    if revdb_denotes r v then want_commit r v t a
-    else match (norm_base r (fst v), snd v) with
-         | (BBranch b, []) =>                         (* dirty branch: `db/branch` is the branch's working set *)
-           match branch_working r b with
-           | Some w => match assoc t (d_schema w) with
-                       | Some cols => ans_eqb a (ARows cols (rows_of t (d_data w)))
-                       | None => is_error a
-                       end
-           | None => is_error a
-           end
-         | _ => match a with ARows _ _ | AHist _ _ => want_commit r v t a | _ => true end   (* refusing is fine; rows must be the right ones *)
-         end
-t    if revdb_denotes r v then want_commit r v t a
-    else match (norm_base r (fst v), snd v) with
-         | (BBranch b, []) =>                         (* dirty branch: `db/branch` is the branch's working set *)
-           match branch_working r b with
-           | Some w => match assoc t (d_schema w) with
-                       | Some cols => ans_eqb a (ARows cols (rows_of t (d_data w)))
-                       | None => is_error a
-                       end
-           | None => is_error a
-           end
-         | _ => match a with ARows _ _ | AHist _ _ => want_commit r v t a | _ => true end   (* refusing is fine; rows must be the right ones *)
-         end
-c    if revdb_denotes r v then want_commit r v t a
-    else match (norm_base r (fst v), snd v) with
-         | (BBranch b, []) =>                         (* dirty branch: `db/branch` is the branch's working set *)
-           match branch_working r b with
-           | Some w => match assoc t (d_schema w) with
-                       | Some cols => ans_eqb a (ARows cols (rows_of t (d_data w)))
-                       | None => is_error a
-                       end
-           | None => is_error a
-           end
-         | _ => match a with ARows _ _ | AHist _ _ => want_commit r v t a | _ => true end   (* refusing is fine; rows must be the right ones *)
-         end
-h    if revdb_denotes r v then want_commit r v t a
-    else match (norm_base r (fst v), snd v) with
-         | (BBranch b, []) =>                         (* dirty branch: `db/branch` is the branch's working set *)
-           match branch_working r b with
-           | Some w => match assoc t (d_schema w) with
-                       | Some cols => ans_eqb a (ARows cols (rows_of t (d_data w)))
-                       | None => is_error a
-                       end
-           | None => is_error a
-           end
-         | _ => match a with ARows _ _ | AHist _ _ => want_commit r v t a | _ => true end   (* refusing is fine; rows must be the right ones *)
-         end
-     if revdb_denotes r v then want_commit r v t a
-    else match (norm_base r (fst v), snd v) with
-         | (BBranch b, []) =>                         (* dirty branch: `db/branch` is the branch's working set *)
-           match branch_working r b with
-           | Some w => match assoc t (d_schema w) with
-                       | Some cols => ans_eqb a (ARows cols (rows_of t (d_data w)))
-                       | None => is_error a
-                       end
-           | None => is_error a
-           end
-         | _ => match a with ARows _ _ | AHist _ _ => want_commit r v t a | _ => true end   (* refusing is fine; rows must be the right ones *)
-         end
-c    if revdb_denotes r v then want_commit r v t a
-    else match (norm_base r (fst v), snd v) with
-         | (BBranch b, []) =>                         (* dirty branch: `db/branch` is the branch's working set *)
-           match branch_working r b with
-           | Some w => match assoc t (d_schema w) with
-                       | Some cols => ans_eqb a (ARows cols (rows_of t (d_data w)))
-                       | None => is_error a
-                       end
-           | None => is_error a
-           end
-         | _ => match a with ARows _ _ | AHist _ _ => want_commit r v t a | _ => true end   (* refusing is fine; rows must be the right ones *)
-         end
-u    if revdb_denotes r v then want_commit r v t a
-    else match (norm_base r (fst v), snd v) with
-         | (BBranch b, []) =>                         (* dirty branch: `db/branch` is the branch's working set *)
-           match branch_working r b with
-           | Some w => match assoc t (d_schema w) with
-                       | Some cols => ans_eqb a (ARows cols (rows_of t (d_data w)))
-                       | None => is_error a
-                       end
-           | None => is_error a
-           end
-         | _ => match a with ARows _ _ | AHist _ _ => want_commit r v t a | _ => true end   (* refusing is fine; rows must be the right ones *)
-         end
-r    if revdb_denotes r v then want_commit r v t a
-    else match (norm_base r (fst v), snd v) with
-         | (BBranch b, []) =>                         (* dirty branch: `db/branch` is the branch's working set *)
-           match branch_working r b with
-           | Some w => match assoc t (d_schema w) with
-                       | Some cols => ans_eqb a (ARows cols (rows_of t (d_data w)))
-                       | None => is_error a
-                       end
-           | None => is_error a
-           end
-         | _ => match a with ARows _ _ | AHist _ _ => want_commit r v t a | _ => true end   (* refusing is fine; rows must be the right ones *)
-         end
-_    if revdb_denotes r v then want_commit r v t a
-    else match (norm_base r (fst v), snd v) with
-         | (BBranch b, []) =>                         (* dirty branch: `db/branch` is the branch's working set *)
-           match branch_working r b with
-           | Some w => match assoc t (d_schema w) with
-                       | Some cols => ans_eqb a (ARows cols (rows_of t (d_data w)))
-                       | None => is_error a
-                       end
-           | None => is_error a
-           end
-         | _ => match a with ARows _ _ | AHist _ _ => want_commit r v t a | _ => true end   (* refusing is fine; rows must be the right ones *)
-         end
-s    if revdb_denotes r v then want_commit r v t a
-    else match (norm_base r (fst v), snd v) with
-         | (BBranch b, []) =>                         (* dirty branch: `db/branch` is the branch's working set *)
-           match branch_working r b with
-           | Some w => match assoc t (d_schema w) with
-                       | Some cols => ans_eqb a (ARows cols (rows_of t (d_data w)))
-                       | None => is_error a
-                       end
-           | None => is_error a
-           end
-         | _ => match a with ARows _ _ | AHist _ _ => want_commit r v t a | _ => true end   (* refusing is fine; rows must be the right ones *)
-         end
-c    if revdb_denotes r v then want_commit r v t a
-    else match (norm_base r (fst v), snd v) with
-         | (BBranch b, []) =>                         (* dirty branch: `db/branch` is the branch's working set *)
-           match branch_working r b with
-           | Some w => match assoc t (d_schema w) with
-                       | Some cols => ans_eqb a (ARows cols (rows_of t (d_data w)))
-                       | None => is_error a
-                       end
-           | None => is_error a
-           end
-         | _ => match a with ARows _ _ | AHist _ _ => want_commit r v t a | _ => true end   (* refusing is fine; rows must be the right ones *)
-         end
-h    if revdb_denotes r v then want_commit r v t a
-    else match (norm_base r (fst v), snd v) with
-         | (BBranch b, []) =>                         (* dirty branch: `db/branch` is the branch's working set *)
-           match branch_working r b with
-           | Some w => match assoc t (d_schema w) with
-                       | Some cols => ans_eqb a (ARows cols (rows_of t (d_data w)))
-                       | None => is_error a
-                       end
-           | None => is_error a
-           end
-         | _ => match a with ARows _ _ | AHist _ _ => want_commit r v t a | _ => true end   (* refusing is fine; rows must be the right ones *)
-         end
-e    if revdb_denotes r v then want_commit r v t a
-    else match (norm_base r (fst v), snd v) with
-         | (BBranch b, []) =>                         (* dirty branch: `db/branch` is the branch's working set *)
-           match branch_working r b with
-           | Some w => match assoc t (d_schema w) with
-                       | Some cols => ans_eqb a (ARows cols (rows_of t (d_data w)))
-                       | None => is_error a
-                       end
-           | None => is_error a
-           end
-         | _ => match a with ARows _ _ | AHist _ _ => want_commit r v t a | _ => true end   (* refusing is fine; rows must be the right ones *)
-         end
-m    if revdb_denotes r v then want_commit r v t a
-    else match (norm_base r (fst v), snd v) with
-         | (BBranch b, []) =>                         (* dirty branch: `db/branch` is the branch's working set *)
-           match branch_working r b with
-           | Some w => match assoc t (d_schema w) with
-                       | Some cols => ans_eqb a (ARows cols (rows_of t (d_data w)))
-                       | None => is_error a
-                       end
-           | None => is_error a
-           end
-         | _ => match a with ARows _ _ | AHist _ _ => want_commit r v t a | _ => true end   (* refusing is fine; rows must be the right ones *)
-         end
-a    if revdb_denotes r v then want_commit r v t a
-    else match (norm_base r (fst v), snd v) with
-         | (BBranch b, []) =>                         (* dirty branch: `db/branch` is the branch's working set *)
-           match branch_working r b with
-           | Some w => match assoc t (d_schema w) with
-                       | Some cols => ans_eqb a (ARows cols (rows_of t (d_data w)))
-                       | None => is_error a
-                       end
-           | None => is_error a
-           end
-         | _ => match a with ARows _ _ | AHist _ _ => want_commit r v t a | _ => true end   (* refusing is fine; rows must be the right ones *)
-         end
-     if revdb_denotes r v then want_commit r v t a
-    else match (norm_base r (fst v), snd v) with
-         | (BBranch b, []) =>                         (* dirty branch: `db/branch` is the branch's working set *)
-           match branch_working r b with
-           | Some w => match assoc t (d_schema w) with
-                       | Some cols => ans_eqb a (ARows cols (rows_of t (d_data w)))
-                       | None => is_error a
-                       end
-           | None => is_error a
-           end
-         | _ => match a with ARows _ _ | AHist _ _ => want_commit r v t a | _ => true end   (* refusing is fine; rows must be the right ones *)
-         end
-r    if revdb_denotes r v then want_commit r v t a
-    else match (norm_base r (fst v), snd v) with
-         | (BBranch b, []) =>                         (* dirty branch: `db/branch` is the branch's working set *)
-           match branch_working r b with
-           | Some w => match assoc t (d_schema w) with
-                       | Some cols => ans_eqb a (ARows cols (rows_of t (d_data w)))
-                       | None => is_error a
-                       end
-           | None => is_error a
-           end
-         | _ => match a with ARows _ _ | AHist _ _ => want_commit r v t a | _ => true end   (* refusing is fine; rows must be the right ones *)
-         end
-     if revdb_denotes r v then want_commit r v t a
-    else match (norm_base r (fst v), snd v) with
-         | (BBranch b, []) =>                         (* dirty branch: `db/branch` is the branch's working set *)
-           match branch_working r b with
-           | Some w => match assoc t (d_schema w) with
-                       | Some cols => ans_eqb a (ARows cols (rows_of t (d_data w)))
-                       | None => is_error a
-                       end
-           | None => is_error a
-           end
-         | _ => match a with ARows _ _ | AHist _ _ => want_commit r v t a | _ => true end   (* refusing is fine; rows must be the right ones *)
-         end
-t    if revdb_denotes r v then want_commit r v t a
-    else match (norm_base r (fst v), snd v) with
-         | (BBranch b, []) =>                         (* dirty branch: `db/branch` is the branch's working set *)
-           match branch_working r b with
-           | Some w => match assoc t (d_schema w) with
-                       | Some cols => ans_eqb a (ARows cols (rows_of t (d_data w)))
-                       | None => is_error a
-                       end
-           | None => is_error a
-           end
-         | _ => match a with ARows _ _ | AHist _ _ => want_commit r v t a | _ => true end   (* refusing is fine; rows must be the right ones *)
-         end
-,    if revdb_denotes r v then want_commit r v t a
-    else match (norm_base r (fst v), snd v) with
-         | (BBranch b, []) =>                         (* dirty branch: `db/branch` is the branch's working set *)
-           match branch_working r b with
-           | Some w => match assoc t (d_schema w) with
-                       | Some cols => ans_eqb a (ARows cols (rows_of t (d_data w)))
-                       | None => is_error a
-                       end
-           | None => is_error a
-           end
-         | _ => match a with ARows _ _ | AHist _ _ => want_commit r v t a | _ => true end   (* refusing is fine; rows must be the right ones *)
-         end
-     if revdb_denotes r v then want_commit r v t a
-    else match (norm_base r (fst v), snd v) with
-         | (BBranch b, []) =>                         (* dirty branch: `db/branch` is the branch's working set *)
-           match branch_working r b with
-           | Some w => match assoc t (d_schema w) with
-                       | Some cols => ans_eqb a (ARows cols (rows_of t (d_data w)))
-                       | None => is_error a
-                       end
-           | None => is_error a
-           end
-         | _ => match a with ARows _ _ | AHist _ _ => want_commit r v t a | _ => true end   (* refusing is fine; rows must be the right ones *)
-         end
-b    if revdb_denotes r v then want_commit r v t a
-    else match (norm_base r (fst v), snd v) with
-         | (BBranch b, []) =>                         (* dirty branch: `db/branch` is the branch's working set *)
-           match branch_working r b with
-           | Some w => match assoc t (d_schema w) with
-                       | Some cols => ans_eqb a (ARows cols (rows_of t (d_data w)))
-                       | None => is_error a
-                       end
-           | None => is_error a
-           end
-         | _ => match a with ARows _ _ | AHist _ _ => want_commit r v t a | _ => true end   (* refusing is fine; rows must be the right ones *)
-         end
-r    if revdb_denotes r v then want_commit r v t a
-    else match (norm_base r (fst v), snd v) with
-         | (BBranch b, []) =>                         (* dirty branch: `db/branch` is the branch's working set *)
-           match branch_working r b with
-           | Some w => match assoc t (d_schema w) with
-                       | Some cols => ans_eqb a (ARows cols (rows_of t (d_data w)))
-                       | None => is_error a
-                       end
-           | None => is_error a
-           end
-         | _ => match a with ARows _ _ | AHist _ _ => want_commit r v t a | _ => true end   (* refusing is fine; rows must be the right ones *)
-         end
-a    if revdb_denotes r v then want_commit r v t a
-    else match (norm_base r (fst v), snd v) with
-         | (BBranch b, []) =>                         (* dirty branch: `db/branch` is the branch's working set *)
-           match branch_working r b with
-           | Some w => match assoc t (d_schema w) with
-                       | Some cols => ans_eqb a (ARows cols (rows_of t (d_data w)))
-                       | None => is_error a
-                       end
-           | None => is_error a
-           end
-         | _ => match a with ARows _ _ | AHist _ _ => want_commit r v t a | _ => true end   (* refusing is fine; rows must be the right ones *)
-         end
-n    if revdb_denotes r v then want_commit r v t a
-    else match (norm_base r (fst v), snd v) with
-         | (BBranch b, []) =>                         (* dirty branch: `db/branch` is the branch's working set *)
-           match branch_working r b with
-           | Some w => match assoc t (d_schema w) with
-                       | Some cols => ans_eqb a (ARows cols (rows_of t (d_data w)))
-                       | None => is_error a
-                       end
-           | None => is_error a
-           end
-         | _ => match a with ARows _ _ | AHist _ _ => want_commit r v t a | _ => true end   (* refusing is fine; rows must be the right ones *)
-         end
-c    if revdb_denotes r v then want_commit r v t a
-    else match (norm_base r (fst v), snd v) with
-         | (BBranch b, []) =>                         (* dirty branch: `db/branch` is the branch's working set *)
-           match branch_working r b with
-           | Some w => match assoc t (d_schema w) with
-                       | Some cols => ans_eqb a (ARows cols (rows_of t (d_data w)))
-                       | None => is_error a
-                       end
-           | None => is_error a
-           end
-         | _ => match a with ARows _ _ | AHist _ _ => want_commit r v t a | _ => true end   (* refusing is fine; rows must be the right ones *)
-         end
-h    if revdb_denotes r v then want_commit r v t a
-    else match (norm_base r (fst v), snd v) with
-         | (BBranch b, []) =>                         (* dirty branch: `db/branch` is the branch's working set *)
-           match branch_working r b with
-           | Some w => match assoc t (d_schema w) with
-                       | Some cols => ans_eqb a (ARows cols (rows_of t (d_data w)))
-                       | None => is_error a
-                       end
-           | None => is_error a
-           end
-         | _ => match a with ARows _ _ | AHist _ _ => want_commit r v t a | _ => true end   (* refusing is fine; rows must be the right ones *)
-         end
-_    if revdb_denotes r v then want_commit r v t a
-    else match (norm_base r (fst v), snd v) with
-         | (BBranch b, []) =>                         (* dirty branch: `db/branch` is the branch's working set *)
-           match branch_working r b with
-           | Some w => match assoc t (d_schema w) with
-                       | Some cols => ans_eqb a (ARows cols (rows_of t (d_data w)))
-                       | None => is_error a
-                       end
-           | None => is_error a
-           end
-         | _ => match a with ARows _ _ | AHist _ _ => want_commit r v t a | _ => true end   (* refusing is fine; rows must be the right ones *)
-         end
-h    if revdb_denotes r v then want_commit r v t a
-    else match (norm_base r (fst v), snd v) with
-         | (BBranch b, []) =>                         (* dirty branch: `db/branch` is the branch's working set *)
-           match branch_working r b with
-           | Some w => match assoc t (d_schema w) with
-                       | Some cols => ans_eqb a (ARows cols (rows_of t (d_data w)))
-                       | None => is_error a
-                       end
-           | None => is_error a
-           end
-         | _ => match a with ARows _ _ | AHist _ _ => want_commit r v t a | _ => true end   (* refusing is fine; rows must be the right ones *)
-         end
-e    if revdb_denotes r v then want_commit r v t a
-    else match (norm_base r (fst v), snd v) with
-         | (BBranch b, []) =>                         (* dirty branch: `db/branch` is the branch's working set *)
-           match branch_working r b with
-           | Some w => match assoc t (d_schema w) with
-                       | Some cols => ans_eqb a (ARows cols (rows_of t (d_data w)))
-                       | None => is_error a
-                       end
-           | None => is_error a
-           end
-         | _ => match a with ARows _ _ | AHist _ _ => want_commit r v t a | _ => true end   (* refusing is fine; rows must be the right ones *)
-         end
-a    if revdb_denotes r v then want_commit r v t a
-    else match (norm_base r (fst v), snd v) with
-         | (BBranch b, []) =>                         (* dirty branch: `db/branch` is the branch's working set *)
-           match branch_working r b with
-           | Some w => match assoc t (d_schema w) with
-                       | Some cols => ans_eqb a (ARows cols (rows_of t (d_data w)))
-                       | None => is_error a
-                       end
-           | None => is_error a
-           end
-         | _ => match a with ARows _ _ | AHist _ _ => want_commit r v t a | _ => true end   (* refusing is fine; rows must be the right ones *)
-         end
-d    if revdb_denotes r v then want_commit r v t a
-    else match (norm_base r (fst v), snd v) with
-         | (BBranch b, []) =>                         (* dirty branch: `db/branch` is the branch's working set *)
-           match branch_working r b with
-           | Some w => match assoc t (d_schema w) with
-                       | Some cols => ans_eqb a (ARows cols (rows_of t (d_data w)))
-                       | None => is_error a
-                       end
-           | None => is_error a
-           end
-         | _ => match a with ARows _ _ | AHist _ _ => want_commit r v t a | _ => true end   (* refusing is fine; rows must be the right ones *)
-         end
-     if revdb_denotes r v then want_commit r v t a
-    else match (norm_base r (fst v), snd v) with
-         | (BBranch b, []) =>                         (* dirty branch: `db/branch` is the branch's working set *)
-           match branch_working r b with
-           | Some w => match assoc t (d_schema w) with
-                       | Some cols => ans_eqb a (ARows cols (rows_of t (d_data w)))
-                       | None => is_error a
-                       end
-           | None => is_error a
-           end
-         | _ => match a with ARows _ _ | AHist _ _ => want_commit r v t a | _ => true end   (* refusing is fine; rows must be the right ones *)
-         end
-r    if revdb_denotes r v then want_commit r v t a
-    else match (norm_base r (fst v), snd v) with
-         | (BBranch b, []) =>                         (* dirty branch: `db/branch` is the branch's working set *)
-           match branch_working r b with
-           | Some w => match assoc t (d_schema w) with
-                       | Some cols => ans_eqb a (ARows cols (rows_of t (d_data w)))
-                       | None => is_error a
-                       end
-           | None => is_error a
-           end
-         | _ => match a with ARows _ _ | AHist _ _ => want_commit r v t a | _ => true end   (* refusing is fine; rows must be the right ones *)
-         end
-     if revdb_denotes r v then want_commit r v t a
-    else match (norm_base r (fst v), snd v) with
-         | (BBranch b, []) =>                         (* dirty branch: `db/branch` is the branch's working set *)
-           match branch_working r b with
-           | Some w => match assoc t (d_schema w) with
-                       | Some cols => ans_eqb a (ARows cols (rows_of t (d_data w)))
-                       | None => is_error a
-                       end
-           | None => is_error a
-           end
-         | _ => match a with ARows _ _ | AHist _ _ => want_commit r v t a | _ => true end   (* refusing is fine; rows must be the right ones *)
-         end
-(    if revdb_denotes r v then want_commit r v t a
-    else match (norm_base r (fst v), snd v) with
-         | (BBranch b, []) =>                         (* dirty branch: `db/branch` is the branch's working set *)
-           match branch_working r b with
-           | Some w => match assoc t (d_schema w) with
-                       | Some cols => ans_eqb a (ARows cols (rows_of t (d_data w)))
-                       | None => is_error a
-                       end
-           | None => is_error a
-           end
-         | _ => match a with ARows _ _ | AHist _ _ => want_commit r v t a | _ => true end   (* refusing is fine; rows must be the right ones *)
-         end
-r    if revdb_denotes r v then want_commit r v t a
-    else match (norm_base r (fst v), snd v) with
-         | (BBranch b, []) =>                         (* dirty branch: `db/branch` is the branch's working set *)
-           match branch_working r b with
-           | Some w => match assoc t (d_schema w) with
-                       | Some cols => ans_eqb a (ARows cols (rows_of t (d_data w)))
-                       | None => is_error a
-                       end
-           | None => is_error a
-           end
-         | _ => match a with ARows _ _ | AHist _ _ => want_commit r v t a | _ => true end   (* refusing is fine; rows must be the right ones *)
-         end
-_    if revdb_denotes r v then want_commit r v t a
-    else match (norm_base r (fst v), snd v) with
-         | (BBranch b, []) =>                         (* dirty branch: `db/branch` is the branch's working set *)
-           match branch_working r b with
-           | Some w => match assoc t (d_schema w) with
-                       | Some cols => ans_eqb a (ARows cols (rows_of t (d_data w)))
-                       | None => is_error a
-                       end
-           | None => is_error a
-           end
-         | _ => match a with ARows _ _ | AHist _ _ => want_commit r v t a | _ => true end   (* refusing is fine; rows must be the right ones *)
-         end
-c    if revdb_denotes r v then want_commit r v t a
-    else match (norm_base r (fst v), snd v) with
-         | (BBranch b, []) =>                         (* dirty branch: `db/branch` is the branch's working set *)
-           match branch_working r b with
-           | Some w => match assoc t (d_schema w) with
-                       | Some cols => ans_eqb a (ARows cols (rows_of t (d_data w)))
-                       | None => is_error a
-                       end
-           | None => is_error a
-           end
-         | _ => match a with ARows _ _ | AHist _ _ => want_commit r v t a | _ => true end   (* refusing is fine; rows must be the right ones *)
-         end
-u    if revdb_denotes r v then want_commit r v t a
-    else match (norm_base r (fst v), snd v) with
-         | (BBranch b, []) =>                         (* dirty branch: `db/branch` is the branch's working set *)
-           match branch_working r b with
-           | Some w => match assoc t (d_schema w) with
-                       | Some cols => ans_eqb a (ARows cols (rows_of t (d_data w)))
-                       | None => is_error a
-                       end
-           | None => is_error a
-           end
-         | _ => match a with ARows _ _ | AHist _ _ => want_commit r v t a | _ => true end   (* refusing is fine; rows must be the right ones *)
-         end
-r    if revdb_denotes r v then want_commit r v t a
-    else match (norm_base r (fst v), snd v) with
-         | (BBranch b, []) =>                         (* dirty branch: `db/branch` is the branch's working set *)
-           match branch_working r b with
-           | Some w => match assoc t (d_schema w) with
-                       | Some cols => ans_eqb a (ARows cols (rows_of t (d_data w)))
-                       | None => is_error a
-                       end
-           | None => is_error a
-           end
-         | _ => match a with ARows _ _ | AHist _ _ => want_commit r v t a | _ => true end   (* refusing is fine; rows must be the right ones *)
-         end
-     if revdb_denotes r v then want_commit r v t a
-    else match (norm_base r (fst v), snd v) with
-         | (BBranch b, []) =>                         (* dirty branch: `db/branch` is the branch's working set *)
-           match branch_working r b with
-           | Some w => match assoc t (d_schema w) with
-                       | Some cols => ans_eqb a (ARows cols (rows_of t (d_data w)))
-                       | None => is_error a
-                       end
-           | None => is_error a
-           end
-         | _ => match a with ARows _ _ | AHist _ _ => want_commit r v t a | _ => true end   (* refusing is fine; rows must be the right ones *)
-         end
-r    if revdb_denotes r v then want_commit r v t a
-    else match (norm_base r (fst v), snd v) with
-         | (BBranch b, []) =>                         (* dirty branch: `db/branch` is the branch's working set *)
-           match branch_working r b with
-           | Some w => match assoc t (d_schema w) with
-                       | Some cols => ans_eqb a (ARows cols (rows_of t (d_data w)))
-                       | None => is_error a
-                       end
-           | None => is_error a
-           end
-         | _ => match a with ARows _ _ | AHist _ _ => want_commit r v t a | _ => true end   (* refusing is fine; rows must be the right ones *)
-         end
-)    if revdb_denotes r v then want_commit r v t a
-    else match (norm_base r (fst v), snd v) with
-         | (BBranch b, []) =>                         (* dirty branch: `db/branch` is the branch's working set *)
-           match branch_working r b with
-           | Some w => match assoc t (d_schema w) with
-                       | Some cols => ans_eqb a (ARows cols (rows_of t (d_data w)))
-                       | None => is_error a
-                       end
-           | None => is_error a
-           end
-         | _ => match a with ARows _ _ | AHist _ _ => want_commit r v t a | _ => true end   (* refusing is fine; rows must be the right ones *)
-         end
-     if revdb_denotes r v then want_commit r v t a
-    else match (norm_base r (fst v), snd v) with
-         | (BBranch b, []) =>                         (* dirty branch: `db/branch` is the branch's working set *)
-           match branch_working r b with
-           | Some w => match assoc t (d_schema w) with
-                       | Some cols => ans_eqb a (ARows cols (rows_of t (d_data w)))
-                       | None => is_error a
-                       end
-           | None => is_error a
-           end
-         | _ => match a with ARows _ _ | AHist _ _ => want_commit r v t a | _ => true end   (* refusing is fine; rows must be the right ones *)
-         end
-w    if revdb_denotes r v then want_commit r v t a
-    else match (norm_base r (fst v), snd v) with
-         | (BBranch b, []) =>                         (* dirty branch: `db/branch` is the branch's working set *)
-           match branch_working r b with
-           | Some w => match assoc t (d_schema w) with
-                       | Some cols => ans_eqb a (ARows cols (rows_of t (d_data w)))
-                       | None => is_error a
-                       end
-           | None => is_error a
-           end
-         | _ => match a with ARows _ _ | AHist _ _ => want_commit r v t a | _ => true end   (* refusing is fine; rows must be the right ones *)
-         end
-i    if revdb_denotes r v then want_commit r v t a
-    else match (norm_base r (fst v), snd v) with
-         | (BBranch b, []) =>                         (* dirty branch: `db/branch` is the branch's working set *)
-           match branch_working r b with
-           | Some w => match assoc t (d_schema w) with
-                       | Some cols => ans_eqb a (ARows cols (rows_of t (d_data w)))
-                       | None => is_error a
-                       end
-           | None => is_error a
-           end
-         | _ => match a with ARows _ _ | AHist _ _ => want_commit r v t a | _ => true end   (* refusing is fine; rows must be the right ones *)
-         end
-t    if revdb_denotes r v then want_commit r v t a
-    else match (norm_base r (fst v), snd v) with
-         | (BBranch b, []) =>                         (* dirty branch: `db/branch` is the branch's working set *)
-           match branch_working r b with
-           | Some w => match assoc t (d_schema w) with
-                       | Some cols => ans_eqb a (ARows cols (rows_of t (d_data w)))
-                       | None => is_error a
-                       end
-           | None => is_error a
-           end
-         | _ => match a with ARows _ _ | AHist _ _ => want_commit r v t a | _ => true end   (* refusing is fine; rows must be the right ones *)
-         end
-h    if revdb_denotes r v then want_commit r v t a
-    else match (norm_base r (fst v), snd v) with
-         | (BBranch b, []) =>                         (* dirty branch: `db/branch` is the branch's working set *)
-           match branch_working r b with
-           | Some w => match assoc t (d_schema w) with
-                       | Some cols => ans_eqb a (ARows cols (rows_of t (d_data w)))
-                       | None => is_error a
-                       end
-           | None => is_error a
-           end
-         | _ => match a with ARows _ _ | AHist _ _ => want_commit r v t a | _ => true end   (* refusing is fine; rows must be the right ones *)
-         end
-
-    if revdb_denotes r v then want_commit r v t a
-    else match (norm_base r (fst v), snd v) with
-         | (BBranch b, []) =>                         (* dirty branch: `db/branch` is the branch's working set *)
-           match branch_working r b with
-           | Some w => match assoc t (d_schema w) with
-                       | Some cols => ans_eqb a (ARows cols (rows_of t (d_data w)))
-                       | None => is_error a
-                       end
-           | None => is_error a
-           end
-         | _ => match a with ARows _ _ | AHist _ _ => want_commit r v t a | _ => true end   (* refusing is fine; rows must be the right ones *)
-         end
-     if revdb_denotes r v then want_commit r v t a
-    else match (norm_base r (fst v), snd v) with
-         | (BBranch b, []) =>                         (* dirty branch: `db/branch` is the branch's working set *)
-           match branch_working r b with
-           | Some w => match assoc t (d_schema w) with
-                       | Some cols => ans_eqb a (ARows cols (rows_of t (d_data w)))
-                       | None => is_error a
-                       end
-           | None => is_error a
-           end
-         | _ => match a with ARows _ _ | AHist _ _ => want_commit r v t a | _ => true end   (* refusing is fine; rows must be the right ones *)
-         end
-     if revdb_denotes r v then want_commit r v t a
-    else match (norm_base r (fst v), snd v) with
-         | (BBranch b, []) =>                         (* dirty branch: `db/branch` is the branch's working set *)
-           match branch_working r b with
-           | Some w => match assoc t (d_schema w) with
-                       | Some cols => ans_eqb a (ARows cols (rows_of t (d_data w)))
-                       | None => is_error a
-                       end
-           | None => is_error a
-           end
-         | _ => match a with ARows _ _ | AHist _ _ => want_commit r v t a | _ => true end   (* refusing is fine; rows must be the right ones *)
-         end
-     if revdb_denotes r v then want_commit r v t a
-    else match (norm_base r (fst v), snd v) with
-         | (BBranch b, []) =>                         (* dirty branch: `db/branch` is the branch's working set *)
-           match branch_working r b with
-           | Some w => match assoc t (d_schema w) with
-                       | Some cols => ans_eqb a (ARows cols (rows_of t (d_data w)))
-                       | None => is_error a
-                       end
-           | None => is_error a
-           end
-         | _ => match a with ARows _ _ | AHist _ _ => want_commit r v t a | _ => true end   (* refusing is fine; rows must be the right ones *)
-         end
-     if revdb_denotes r v then want_commit r v t a
-    else match (norm_base r (fst v), snd v) with
-         | (BBranch b, []) =>                         (* dirty branch: `db/branch` is the branch's working set *)
-           match branch_working r b with
-           | Some w => match assoc t (d_schema w) with
-                       | Some cols => ans_eqb a (ARows cols (rows_of t (d_data w)))
-                       | None => is_error a
-                       end
-           | None => is_error a
-           end
-         | _ => match a with ARows _ _ | AHist _ _ => want_commit r v t a | _ => true end   (* refusing is fine; rows must be the right ones *)
-         end
-|    if revdb_denotes r v then want_commit r v t a
-    else match (norm_base r (fst v), snd v) with
-         | (BBranch b, []) =>                         (* dirty branch: `db/branch` is the branch's working set *)
-           match branch_working r b with
-           | Some w => match assoc t (d_schema w) with
-                       | Some cols => ans_eqb a (ARows cols (rows_of t (d_data w)))
-                       | None => is_error a
-                       end
-           | None => is_error a
-           end
-         | _ => match a with ARows _ _ | AHist _ _ => want_commit r v t a | _ => true end   (* refusing is fine; rows must be the right ones *)
-         end
-     if revdb_denotes r v then want_commit r v t a
-    else match (norm_base r (fst v), snd v) with
-         | (BBranch b, []) =>                         (* dirty branch: `db/branch` is the branch's working set *)
-           match branch_working r b with
-           | Some w => match assoc t (d_schema w) with
-                       | Some cols => ans_eqb a (ARows cols (rows_of t (d_data w)))
-                       | None => is_error a
-                       end
-           | None => is_error a
-           end
-         | _ => match a with ARows _ _ | AHist _ _ => want_commit r v t a | _ => true end   (* refusing is fine; rows must be the right ones *)
-         end
-S    if revdb_denotes r v then want_commit r v t a
-    else match (norm_base r (fst v), snd v) with
-         | (BBranch b, []) =>                         (* dirty branch: `db/branch` is the branch's working set *)
-           match branch_working r b with
-           | Some w => match assoc t (d_schema w) with
-                       | Some cols => ans_eqb a (ARows cols (rows_of t (d_data w)))
-                       | None => is_error a
-                       end
-           | None => is_error a
-           end
-         | _ => match a with ARows _ _ | AHist _ _ => want_commit r v t a | _ => true end   (* refusing is fine; rows must be the right ones *)
-         end
-o    if revdb_denotes r v then want_commit r v t a
-    else match (norm_base r (fst v), snd v) with
-         | (BBranch b, []) =>                         (* dirty branch: `db/branch` is the branch's working set *)
-           match branch_working r b with
-           | Some w => match assoc t (d_schema w) with
-                       | Some cols => ans_eqb a (ARows cols (rows_of t (d_data w)))
-                       | None => is_error a
-                       end
-           | None => is_error a
-           end
-         | _ => match a with ARows _ _ | AHist _ _ => want_commit r v t a | _ => true end   (* refusing is fine; rows must be the right ones *)
-         end
-m    if revdb_denotes r v then want_commit r v t a
-    else match (norm_base r (fst v), snd v) with
-         | (BBranch b, []) =>                         (* dirty branch: `db/branch` is the branch's working set *)
-           match branch_working r b with
-           | Some w => match assoc t (d_schema w) with
-                       | Some cols => ans_eqb a (ARows cols (rows_of t (d_data w)))
-                       | None => is_error a
-                       end
-           | None => is_error a
-           end
-         | _ => match a with ARows _ _ | AHist _ _ => want_commit r v t a | _ => true end   (* refusing is fine; rows must be the right ones *)
-         end
-e    if revdb_denotes r v then want_commit r v t a
-    else match (norm_base r (fst v), snd v) with
-         | (BBranch b, []) =>                         (* dirty branch: `db/branch` is the branch's working set *)
-           match branch_working r b with
-           | Some w => match assoc t (d_schema w) with
-                       | Some cols => ans_eqb a (ARows cols (rows_of t (d_data w)))
-                       | None => is_error a
-                       end
-           | None => is_error a
-           end
-         | _ => match a with ARows _ _ | AHist _ _ => want_commit r v t a | _ => true end   (* refusing is fine; rows must be the right ones *)
-         end
-     if revdb_denotes r v then want_commit r v t a
-    else match (norm_base r (fst v), snd v) with
-         | (BBranch b, []) =>                         (* dirty branch: `db/branch` is the branch's working set *)
-           match branch_working r b with
-           | Some w => match assoc t (d_schema w) with
-                       | Some cols => ans_eqb a (ARows cols (rows_of t (d_data w)))
-                       | None => is_error a
-                       end
-           | None => is_error a
-           end
-         | _ => match a with ARows _ _ | AHist _ _ => want_commit r v t a | _ => true end   (* refusing is fine; rows must be the right ones *)
-         end
-t    if revdb_denotes r v then want_commit r v t a
-    else match (norm_base r (fst v), snd v) with
-         | (BBranch b, []) =>                         (* dirty branch: `db/branch` is the branch's working set *)
-           match branch_working r b with
-           | Some w => match assoc t (d_schema w) with
-                       | Some cols => ans_eqb a (ARows cols (rows_of t (d_data w)))
-                       | None => is_error a
-                       end
-           | None => is_error a
-           end
-         | _ => match a with ARows _ _ | AHist _ _ => want_commit r v t a | _ => true end   (* refusing is fine; rows must be the right ones *)
-         end
-g    if revdb_denotes r v then want_commit r v t a
-    else match (norm_base r (fst v), snd v) with
-         | (BBranch b, []) =>                         (* dirty branch: `db/branch` is the branch's working set *)
-           match branch_working r b with
-           | Some w => match assoc t (d_schema w) with
-                       | Some cols => ans_eqb a (ARows cols (rows_of t (d_data w)))
-                       | None => is_error a
-                       end
-           | None => is_error a
-           end
-         | _ => match a with ARows _ _ | AHist _ _ => want_commit r v t a | _ => true end   (* refusing is fine; rows must be the right ones *)
-         end
-t    if revdb_denotes r v then want_commit r v t a
-    else match (norm_base r (fst v), snd v) with
-         | (BBranch b, []) =>                         (* dirty branch: `db/branch` is the branch's working set *)
-           match branch_working r b with
-           | Some w => match assoc t (d_schema w) with
-                       | Some cols => ans_eqb a (ARows cols (rows_of t (d_data w)))
-                       | None => is_error a
-                       end
-           | None => is_error a
-           end
-         | _ => match a with ARows _ _ | AHist _ _ => want_commit r v t a | _ => true end   (* refusing is fine; rows must be the right ones *)
-         end
-,    if revdb_denotes r v then want_commit r v t a
-    else match (norm_base r (fst v), snd v) with
-         | (BBranch b, []) =>                         (* dirty branch: `db/branch` is the branch's working set *)
-           match branch_working r b with
-           | Some w => match assoc t (d_schema w) with
-                       | Some cols => ans_eqb a (ARows cols (rows_of t (d_data w)))
-                       | None => is_error a
-                       end
-           | None => is_error a
-           end
-         | _ => match a with ARows _ _ | AHist _ _ => want_commit r v t a | _ => true end   (* refusing is fine; rows must be the right ones *)
-         end
-     if revdb_denotes r v then want_commit r v t a
-    else match (norm_base r (fst v), snd v) with
-         | (BBranch b, []) =>                         (* dirty branch: `db/branch` is the branch's working set *)
-           match branch_working r b with
-           | Some w => match assoc t (d_schema w) with
-                       | Some cols => ans_eqb a (ARows cols (rows_of t (d_data w)))
-                       | None => is_error a
-                       end
-           | None => is_error a
-           end
-         | _ => match a with ARows _ _ | AHist _ _ => want_commit r v t a | _ => true end   (* refusing is fine; rows must be the right ones *)
-         end
-S    if revdb_denotes r v then want_commit r v t a
-    else match (norm_base r (fst v), snd v) with
-         | (BBranch b, []) =>                         (* dirty branch: `db/branch` is the branch's working set *)
-           match branch_working r b with
-           | Some w => match assoc t (d_schema w) with
-                       | Some cols => ans_eqb a (ARows cols (rows_of t (d_data w)))
-                       | None => is_error a
-                       end
-           | None => is_error a
-           end
-         | _ => match a with ARows _ _ | AHist _ _ => want_commit r v t a | _ => true end   (* refusing is fine; rows must be the right ones *)
-         end
-o    if revdb_denotes r v then want_commit r v t a
-    else match (norm_base r (fst v), snd v) with
-         | (BBranch b, []) =>                         (* dirty branch: `db/branch` is the branch's working set *)
-           match branch_working r b with
-           | Some w => match assoc t (d_schema w) with
-                       | Some cols => ans_eqb a (ARows cols (rows_of t (d_data w)))
-                       | None => is_error a
-                       end
-           | None => is_error a
-           end
-         | _ => match a with ARows _ _ | AHist _ _ => want_commit r v t a | _ => true end   (* refusing is fine; rows must be the right ones *)
-         end
-m    if revdb_denotes r v then want_commit r v t a
-    else match (norm_base r (fst v), snd v) with
-         | (BBranch b, []) =>                         (* dirty branch: `db/branch` is the branch's working set *)
-           match branch_working r b with
-           | Some w => match assoc t (d_schema w) with
-                       | Some cols => ans_eqb a (ARows cols (rows_of t (d_data w)))
-                       | None => is_error a
-                       end
-           | None => is_error a
-           end
-         | _ => match a with ARows _ _ | AHist _ _ => want_commit r v t a | _ => true end   (* refusing is fine; rows must be the right ones *)
-         end
-e    if revdb_denotes r v then want_commit r v t a
-    else match (norm_base r (fst v), snd v) with
-         | (BBranch b, []) =>                         (* dirty branch: `db/branch` is the branch's working set *)
-           match branch_working r b with
-           | Some w => match assoc t (d_schema w) with
-                       | Some cols => ans_eqb a (ARows cols (rows_of t (d_data w)))
-                       | None => is_error a
-                       end
-           | None => is_error a
-           end
-         | _ => match a with ARows _ _ | AHist _ _ => want_commit r v t a | _ => true end   (* refusing is fine; rows must be the right ones *)
-         end
-     if revdb_denotes r v then want_commit r v t a
-    else match (norm_base r (fst v), snd v) with
-         | (BBranch b, []) =>                         (* dirty branch: `db/branch` is the branch's working set *)
-           match branch_working r b with
-           | Some w => match assoc t (d_schema w) with
-                       | Some cols => ans_eqb a (ARows cols (rows_of t (d_data w)))
-                       | None => is_error a
-                       end
-           | None => is_error a
-           end
-         | _ => match a with ARows _ _ | AHist _ _ => want_commit r v t a | _ => true end   (* refusing is fine; rows must be the right ones *)
-         end
-h    if revdb_denotes r v then want_commit r v t a
-    else match (norm_base r (fst v), snd v) with
-         | (BBranch b, []) =>                         (* dirty branch: `db/branch` is the branch's working set *)
-           match branch_working r b with
-           | Some w => match assoc t (d_schema w) with
-                       | Some cols => ans_eqb a (ARows cols (rows_of t (d_data w)))
-                       | None => is_error a
-                       end
-           | None => is_error a
-           end
-         | _ => match a with ARows _ _ | AHist _ _ => want_commit r v t a | _ => true end   (* refusing is fine; rows must be the right ones *)
-         end
-d    if revdb_denotes r v then want_commit r v t a
-    else match (norm_base r (fst v), snd v) with
-         | (BBranch b, []) =>                         (* dirty branch: `db/branch` is the branch's working set *)
-           match branch_working r b with
-           | Some w => match assoc t (d_schema w) with
-                       | Some cols => ans_eqb a (ARows cols (rows_of t (d_data w)))
-                       | None => is_error a
-                       end
-           | None => is_error a
-           end
-         | _ => match a with ARows _ _ | AHist _ _ => want_commit r v t a | _ => true end   (* refusing is fine; rows must be the right ones *)
-         end
-     if revdb_denotes r v then want_commit r v t a
-    else match (norm_base r (fst v), snd v) with
-         | (BBranch b, []) =>                         (* dirty branch: `db/branch` is the branch's working set *)
-           match branch_working r b with
-           | Some w => match assoc t (d_schema w) with
-                       | Some cols => ans_eqb a (ARows cols (rows_of t (d_data w)))
-                       | None => is_error a
-                       end
-           | None => is_error a
-           end
-         | _ => match a with ARows _ _ | AHist _ _ => want_commit r v t a | _ => true end   (* refusing is fine; rows must be the right ones *)
-         end
-=    if revdb_denotes r v then want_commit r v t a
-    else match (norm_base r (fst v), snd v) with
-         | (BBranch b, []) =>                         (* dirty branch: `db/branch` is the branch's working set *)
-           match branch_working r b with
-           | Some w => match assoc t (d_schema w) with
-                       | Some cols => ans_eqb a (ARows cols (rows_of t (d_data w)))
-                       | None => is_error a
-                       end
-           | None => is_error a
-           end
-         | _ => match a with ARows _ _ | AHist _ _ => want_commit r v t a | _ => true end   (* refusing is fine; rows must be the right ones *)
-         end
->    if revdb_denotes r v then want_commit r v t a
-    else match (norm_base r (fst v), snd v) with
-         | (BBranch b, []) =>                         (* dirty branch: `db/branch` is the branch's working set *)
-           match branch_working r b with
-           | Some w => match assoc t (d_schema w) with
-                       | Some cols => ans_eqb a (ARows cols (rows_of t (d_data w)))
-                       | None => is_error a
-                       end
-           | None => is_error a
-           end
-         | _ => match a with ARows _ _ | AHist _ _ => want_commit r v t a | _ => true end   (* refusing is fine; rows must be the right ones *)
-         end
-     if revdb_denotes r v then want_commit r v t a
-    else match (norm_base r (fst v), snd v) with
-         | (BBranch b, []) =>                         (* dirty branch: `db/branch` is the branch's working set *)
-           match branch_working r b with
-           | Some w => match assoc t (d_schema w) with
-                       | Some cols => ans_eqb a (ARows cols (rows_of t (d_data w)))
-                       | None => is_error a
-                       end
-           | None => is_error a
-           end
-         | _ => match a with ARows _ _ | AHist _ _ => want_commit r v t a | _ => true end   (* refusing is fine; rows must be the right ones *)
-         end
-a    if revdb_denotes r v then want_commit r v t a
-    else match (norm_base r (fst v), snd v) with
-         | (BBranch b, []) =>                         (* dirty branch: `db/branch` is the branch's working set *)
-           match branch_working r b with
-           | Some w => match assoc t (d_schema w) with
-                       | Some cols => ans_eqb a (ARows cols (rows_of t (d_data w)))
-                       | None => is_error a
-                       end
-           | None => is_error a
-           end
-         | _ => match a with ARows _ _ | AHist _ _ => want_commit r v t a | _ => true end   (* refusing is fine; rows must be the right ones *)
-         end
-n    if revdb_denotes r v then want_commit r v t a
-    else match (norm_base r (fst v), snd v) with
-         | (BBranch b, []) =>                         (* dirty branch: `db/branch` is the branch's working set *)
-           match branch_working r b with
-           | Some w => match assoc t (d_schema w) with
-                       | Some cols => ans_eqb a (ARows cols (rows_of t (d_data w)))
-                       | None => is_error a
-                       end
-           | None => is_error a
-           end
-         | _ => match a with ARows _ _ | AHist _ _ => want_commit r v t a | _ => true end   (* refusing is fine; rows must be the right ones *)
-         end
-s    if revdb_denotes r v then want_commit r v t a
-    else match (norm_base r (fst v), snd v) with
-         | (BBranch b, []) =>                         (* dirty branch: `db/branch` is the branch's working set *)
-           match branch_working r b with
-           | Some w => match assoc t (d_schema w) with
-                       | Some cols => ans_eqb a (ARows cols (rows_of t (d_data w)))
-                       | None => is_error a
-                       end
-           | None => is_error a
-           end
-         | _ => match a with ARows _ _ | AHist _ _ => want_commit r v t a | _ => true end   (* refusing is fine; rows must be the right ones *)
-         end
-_    if revdb_denotes r v then want_commit r v t a
-    else match (norm_base r (fst v), snd v) with
-         | (BBranch b, []) =>                         (* dirty branch: `db/branch` is the branch's working set *)
-           match branch_working r b with
-           | Some w => match assoc t (d_schema w) with
-                       | Some cols => ans_eqb a (ARows cols (rows_of t (d_data w)))
-                       | None => is_error a
-                       end
-           | None => is_error a
-           end
-         | _ => match a with ARows _ _ | AHist _ _ => want_commit r v t a | _ => true end   (* refusing is fine; rows must be the right ones *)
-         end
-e    if revdb_denotes r v then want_commit r v t a
-    else match (norm_base r (fst v), snd v) with
-         | (BBranch b, []) =>                         (* dirty branch: `db/branch` is the branch's working set *)
-           match branch_working r b with
-           | Some w => match assoc t (d_schema w) with
-                       | Some cols => ans_eqb a (ARows cols (rows_of t (d_data w)))
-                       | None => is_error a
-                       end
-           | None => is_error a
-           end
-         | _ => match a with ARows _ _ | AHist _ _ => want_commit r v t a | _ => true end   (* refusing is fine; rows must be the right ones *)
-         end
-q    if revdb_denotes r v then want_commit r v t a
-    else match (norm_base r (fst v), snd v) with
-         | (BBranch b, []) =>                         (* dirty branch: `db/branch` is the branch's working set *)
-           match branch_working r b with
-           | Some w => match assoc t (d_schema w) with
-                       | Some cols => ans_eqb a (ARows cols (rows_of t (d_data w)))
-                       | None => is_error a
-                       end
-           | None => is_error a
-           end
-         | _ => match a with ARows _ _ | AHist _ _ => want_commit r v t a | _ => true end   (* refusing is fine; rows must be the right ones *)
-         end
-b    if revdb_denotes r v then want_commit r v t a
-    else match (norm_base r (fst v), snd v) with
-         | (BBranch b, []) =>                         (* dirty branch: `db/branch` is the branch's working set *)
-           match branch_working r b with
-           | Some w => match assoc t (d_schema w) with
-                       | Some cols => ans_eqb a (ARows cols (rows_of t (d_data w)))
-                       | None => is_error a
-                       end
-           | None => is_error a
-           end
-         | _ => match a with ARows _ _ | AHist _ _ => want_commit r v t a | _ => true end   (* refusing is fine; rows must be the right ones *)
-         end
-     if revdb_denotes r v then want_commit r v t a
-    else match (norm_base r (fst v), snd v) with
-         | (BBranch b, []) =>                         (* dirty branch: `db/branch` is the branch's working set *)
-           match branch_working r b with
-           | Some w => match assoc t (d_schema w) with
-                       | Some cols => ans_eqb a (ARows cols (rows_of t (d_data w)))
-                       | None => is_error a
-                       end
-           | None => is_error a
-           end
-         | _ => match a with ARows _ _ | AHist _ _ => want_commit r v t a | _ => true end   (* refusing is fine; rows must be the right ones *)
-         end
-a    if revdb_denotes r v then want_commit r v t a
-    else match (norm_base r (fst v), snd v) with
-         | (BBranch b, []) =>                         (* dirty branch: `db/branch` is the branch's working set *)
-           match branch_working r b with
-           | Some w => match assoc t (d_schema w) with
-                       | Some cols => ans_eqb a (ARows cols (rows_of t (d_data w)))
-                       | None => is_error a
-                       end
-           | None => is_error a
-           end
-         | _ => match a with ARows _ _ | AHist _ _ => want_commit r v t a | _ => true end   (* refusing is fine; rows must be the right ones *)
-         end
-     if revdb_denotes r v then want_commit r v t a
-    else match (norm_base r (fst v), snd v) with
-         | (BBranch b, []) =>                         (* dirty branch: `db/branch` is the branch's working set *)
-           match branch_working r b with
-           | Some w => match assoc t (d_schema w) with
-                       | Some cols => ans_eqb a (ARows cols (rows_of t (d_data w)))
-                       | None => is_error a
-                       end
-           | None => is_error a
-           end
-         | _ => match a with ARows _ _ | AHist _ _ => want_commit r v t a | _ => true end   (* refusing is fine; rows must be the right ones *)
-         end
-(    if revdb_denotes r v then want_commit r v t a
-    else match (norm_base r (fst v), snd v) with
-         | (BBranch b, []) =>                         (* dirty branch: `db/branch` is the branch's working set *)
-           match branch_working r b with
-           | Some w => match assoc t (d_schema w) with
-                       | Some cols => ans_eqb a (ARows cols (rows_of t (d_data w)))
-                       | None => is_error a
-                       end
-           | None => is_error a
-           end
-         | _ => match a with ARows _ _ | AHist _ _ => want_commit r v t a | _ => true end   (* refusing is fine; rows must be the right ones *)
-         end
-A    if revdb_denotes r v then want_commit r v t a
-    else match (norm_base r (fst v), snd v) with
-         | (BBranch b, []) =>                         (* dirty branch: `db/branch` is the branch's working set *)
-           match branch_working r b with
-           | Some w => match assoc t (d_schema w) with
-                       | Some cols => ans_eqb a (ARows cols (rows_of t (d_data w)))
-                       | None => is_error a
-                       end
-           | None => is_error a
-           end
-         | _ => match a with ARows _ _ | AHist _ _ => want_commit r v t a | _ => true end   (* refusing is fine; rows must be the right ones *)
-         end
-H    if revdb_denotes r v then want_commit r v t a
-    else match (norm_base r (fst v), snd v) with
-         | (BBranch b, []) =>                         (* dirty branch: `db/branch` is the branch's working set *)
-           match branch_working r b with
-           | Some w => match assoc t (d_schema w) with
-                       | Some cols => ans_eqb a (ARows cols (rows_of t (d_data w)))
-                       | None => is_error a
-                       end
-           | None => is_error a
-           end
-         | _ => match a with ARows _ _ | AHist _ _ => want_commit r v t a | _ => true end   (* refusing is fine; rows must be the right ones *)
-         end
-i    if revdb_denotes r v then want_commit r v t a
-    else match (norm_base r (fst v), snd v) with
-         | (BBranch b, []) =>                         (* dirty branch: `db/branch` is the branch's working set *)
-           match branch_working r b with
-           | Some w => match assoc t (d_schema w) with
-                       | Some cols => ans_eqb a (ARows cols (rows_of t (d_data w)))
-                       | None => is_error a
-                       end
-           | None => is_error a
-           end
-         | _ => match a with ARows _ _ | AHist _ _ => want_commit r v t a | _ => true end   (* refusing is fine; rows must be the right ones *)
-         end
-s    if revdb_denotes r v then want_commit r v t a
-    else match (norm_base r (fst v), snd v) with
-         | (BBranch b, []) =>                         (* dirty branch: `db/branch` is the branch's working set *)
-           match branch_working r b with
-           | Some w => match assoc t (d_schema w) with
-                       | Some cols => ans_eqb a (ARows cols (rows_of t (d_data w)))
-                       | None => is_error a
-                       end
-           | None => is_error a
-           end
-         | _ => match a with ARows _ _ | AHist _ _ => want_commit r v t a | _ => true end   (* refusing is fine; rows must be the right ones *)
-         end
-t    if revdb_denotes r v then want_commit r v t a
-    else match (norm_base r (fst v), snd v) with
-         | (BBranch b, []) =>                         (* dirty branch: `db/branch` is the branch's working set *)
-           match branch_working r b with
-           | Some w => match assoc t (d_schema w) with
-                       | Some cols => ans_eqb a (ARows cols (rows_of t (d_data w)))
-                       | None => is_error a
-                       end
-           | None => is_error a
-           end
-         | _ => match a with ARows _ _ | AHist _ _ => want_commit r v t a | _ => true end   (* refusing is fine; rows must be the right ones *)
-         end
-     if revdb_denotes r v then want_commit r v t a
-    else match (norm_base r (fst v), snd v) with
-         | (BBranch b, []) =>                         (* dirty branch: `db/branch` is the branch's working set *)
-           match branch_working r b with
-           | Some w => match assoc t (d_schema w) with
-                       | Some cols => ans_eqb a (ARows cols (rows_of t (d_data w)))
-                       | None => is_error a
-                       end
-           | None => is_error a
-           end
-         | _ => match a with ARows _ _ | AHist _ _ => want_commit r v t a | _ => true end   (* refusing is fine; rows must be the right ones *)
-         end
-t    if revdb_denotes r v then want_commit r v t a
-    else match (norm_base r (fst v), snd v) with
-         | (BBranch b, []) =>                         (* dirty branch: `db/branch` is the branch's working set *)
-           match branch_working r b with
-           | Some w => match assoc t (d_schema w) with
-                       | Some cols => ans_eqb a (ARows cols (rows_of t (d_data w)))
-                       | None => is_error a
-                       end
-           | None => is_error a
-           end
-         | _ => match a with ARows _ _ | AHist _ _ => want_commit r v t a | _ => true end   (* refusing is fine; rows must be the right ones *)
-         end
-g    if revdb_denotes r v then want_commit r v t a
-    else match (norm_base r (fst v), snd v) with
-         | (BBranch b, []) =>                         (* dirty branch: `db/branch` is the branch's working set *)
-           match branch_working r b with
-           | Some w => match assoc t (d_schema w) with
-                       | Some cols => ans_eqb a (ARows cols (rows_of t (d_data w)))
-                       | None => is_error a
-                       end
-           | None => is_error a
-           end
-         | _ => match a with ARows _ _ | AHist _ _ => want_commit r v t a | _ => true end   (* refusing is fine; rows must be the right ones *)
-         end
-t    if revdb_denotes r v then want_commit r v t a
-    else match (norm_base r (fst v), snd v) with
-         | (BBranch b, []) =>                         (* dirty branch: `db/branch` is the branch's working set *)
-           match branch_working r b with
-           | Some w => match assoc t (d_schema w) with
-                       | Some cols => ans_eqb a (ARows cols (rows_of t (d_data w)))
-                       | None => is_error a
-                       end
-           | None => is_error a
-           end
-         | _ => match a with ARows _ _ | AHist _ _ => want_commit r v t a | _ => true end   (* refusing is fine; rows must be the right ones *)
-         end
-     if revdb_denotes r v then want_commit r v t a
-    else match (norm_base r (fst v), snd v) with
-         | (BBranch b, []) =>                         (* dirty branch: `db/branch` is the branch's working set *)
-           match branch_working r b with
-           | Some w => match assoc t (d_schema w) with
-                       | Some cols => ans_eqb a (ARows cols (rows_of t (d_data w)))
-                       | None => is_error a
-                       end
-           | None => is_error a
-           end
-         | _ => match a with ARows _ _ | AHist _ _ => want_commit r v t a | _ => true end   (* refusing is fine; rows must be the right ones *)
-         end
-(    if revdb_denotes r v then want_commit r v t a
-    else match (norm_base r (fst v), snd v) with
-         | (BBranch b, []) =>                         (* dirty branch: `db/branch` is the branch's working set *)
-           match branch_working r b with
-           | Some w => match assoc t (d_schema w) with
-                       | Some cols => ans_eqb a (ARows cols (rows_of t (d_data w)))
-                       | None => is_error a
-                       end
-           | None => is_error a
-           end
-         | _ => match a with ARows _ _ | AHist _ _ => want_commit r v t a | _ => true end   (* refusing is fine; rows must be the right ones *)
-         end
-h    if revdb_denotes r v then want_commit r v t a
-    else match (norm_base r (fst v), snd v) with
-         | (BBranch b, []) =>                         (* dirty branch: `db/branch` is the branch's working set *)
-           match branch_working r b with
-           | Some w => match assoc t (d_schema w) with
-                       | Some cols => ans_eqb a (ARows cols (rows_of t (d_data w)))
-                       | None => is_error a
-                       end
-           | None => is_error a
-           end
-         | _ => match a with ARows _ _ | AHist _ _ => want_commit r v t a | _ => true end   (* refusing is fine; rows must be the right ones *)
-         end
-i    if revdb_denotes r v then want_commit r v t a
-    else match (norm_base r (fst v), snd v) with
-         | (BBranch b, []) =>                         (* dirty branch: `db/branch` is the branch's working set *)
-           match branch_working r b with
-           | Some w => match assoc t (d_schema w) with
-                       | Some cols => ans_eqb a (ARows cols (rows_of t (d_data w)))
-                       | None => is_error a
-                       end
-           | None => is_error a
-           end
-         | _ => match a with ARows _ _ | AHist _ _ => want_commit r v t a | _ => true end   (* refusing is fine; rows must be the right ones *)
-         end
-s    if revdb_denotes r v then want_commit r v t a
-    else match (norm_base r (fst v), snd v) with
-         | (BBranch b, []) =>                         (* dirty branch: `db/branch` is the branch's working set *)
-           match branch_working r b with
-           | Some w => match assoc t (d_schema w) with
-                       | Some cols => ans_eqb a (ARows cols (rows_of t (d_data w)))
-                       | None => is_error a
-                       end
-           | None => is_error a
-           end
-         | _ => match a with ARows _ _ | AHist _ _ => want_commit r v t a | _ => true end   (* refusing is fine; rows must be the right ones *)
-         end
-t    if revdb_denotes r v then want_commit r v t a
-    else match (norm_base r (fst v), snd v) with
-         | (BBranch b, []) =>                         (* dirty branch: `db/branch` is the branch's working set *)
-           match branch_working r b with
-           | Some w => match assoc t (d_schema w) with
-                       | Some cols => ans_eqb a (ARows cols (rows_of t (d_data w)))
-                       | None => is_error a
-                       end
-           | None => is_error a
-           end
-         | _ => match a with ARows _ _ | AHist _ _ => want_commit r v t a | _ => true end   (* refusing is fine; rows must be the right ones *)
-         end
-_    if revdb_denotes r v then want_commit r v t a
-    else match (norm_base r (fst v), snd v) with
-         | (BBranch b, []) =>                         (* dirty branch: `db/branch` is the branch's working set *)
-           match branch_working r b with
-           | Some w => match assoc t (d_schema w) with
-                       | Some cols => ans_eqb a (ARows cols (rows_of t (d_data w)))
-                       | None => is_error a
-                       end
-           | None => is_error a
-           end
-         | _ => match a with ARows _ _ | AHist _ _ => want_commit r v t a | _ => true end   (* refusing is fine; rows must be the right ones *)
-         end
-a    if revdb_denotes r v then want_commit r v t a
-    else match (norm_base r (fst v), snd v) with
-         | (BBranch b, []) =>                         (* dirty branch: `db/branch` is the branch's working set *)
-           match branch_working r b with
-           | Some w => match assoc t (d_schema w) with
-                       | Some cols => ans_eqb a (ARows cols (rows_of t (d_data w)))
-                       | None => is_error a
-                       end
-           | None => is_error a
-           end
-         | _ => match a with ARows _ _ | AHist _ _ => want_commit r v t a | _ => true end   (* refusing is fine; rows must be the right ones *)
-         end
-l    if revdb_denotes r v then want_commit r v t a
-    else match (norm_base r (fst v), snd v) with
-         | (BBranch b, []) =>                         (* dirty branch: `db/branch` is the branch's working set *)
-           match branch_working r b with
-           | Some w => match assoc t (d_schema w) with
-                       | Some cols => ans_eqb a (ARows cols (rows_of t (d_data w)))
-                       | None => is_error a
-                       end
-           | None => is_error a
-           end
-         | _ => match a with ARows _ _ | AHist _ _ => want_commit r v t a | _ => true end   (* refusing is fine; rows must be the right ones *)
-         end
-l    if revdb_denotes r v then want_commit r v t a
-    else match (norm_base r (fst v), snd v) with
-         | (BBranch b, []) =>                         (* dirty branch: `db/branch` is the branch's working set *)
-           match branch_working r b with
-           | Some w => match assoc t (d_schema w) with
-                       | Some cols => ans_eqb a (ARows cols (rows_of t (d_data w)))
-                       | None => is_error a
-                       end
-           | None => is_error a
-           end
-         | _ => match a with ARows _ _ | AHist _ _ => want_commit r v t a | _ => true end   (* refusing is fine; rows must be the right ones *)
-         end
-_    if revdb_denotes r v then want_commit r v t a
-    else match (norm_base r (fst v), snd v) with
-         | (BBranch b, []) =>                         (* dirty branch: `db/branch` is the branch's working set *)
-           match branch_working r b with
-           | Some w => match assoc t (d_schema w) with
-                       | Some cols => ans_eqb a (ARows cols (rows_of t (d_data w)))
-                       | None => is_error a
-                       end
-           | None => is_error a
-           end
-         | _ => match a with ARows _ _ | AHist _ _ => want_commit r v t a | _ => true end   (* refusing is fine; rows must be the right ones *)
-         end
-r    if revdb_denotes r v then want_commit r v t a
-    else match (norm_base r (fst v), snd v) with
-         | (BBranch b, []) =>                         (* dirty branch: `db/branch` is the branch's working set *)
-           match branch_working r b with
-           | Some w => match assoc t (d_schema w) with
-                       | Some cols => ans_eqb a (ARows cols (rows_of t (d_data w)))
-                       | None => is_error a
-                       end
-           | None => is_error a
-           end
-         | _ => match a with ARows _ _ | AHist _ _ => want_commit r v t a | _ => true end   (* refusing is fine; rows must be the right ones *)
-         end
-o    if revdb_denotes r v then want_commit r v t a
-    else match (norm_base r (fst v), snd v) with
-         | (BBranch b, []) =>                         (* dirty branch: `db/branch` is the branch's working set *)
-           match branch_working r b with
-           | Some w => match assoc t (d_schema w) with
-                       | Some cols => ans_eqb a (ARows cols (rows_of t (d_data w)))
-                       | None => is_error a
-                       end
-           | None => is_error a
-           end
-         | _ => match a with ARows _ _ | AHist _ _ => want_commit r v t a | _ => true end   (* refusing is fine; rows must be the right ones *)
-         end
-w    if revdb_denotes r v then want_commit r v t a
-    else match (norm_base r (fst v), snd v) with
-         | (BBranch b, []) =>                         (* dirty branch: `db/branch` is the branch's working set *)
-           match branch_working r b with
-           | Some w => match assoc t (d_schema w) with
-                       | Some cols => ans_eqb a (ARows cols (rows_of t (d_data w)))
-                       | None => is_error a
-                       end
-           | None => is_error a
-           end
-         | _ => match a with ARows _ _ | AHist _ _ => want_commit r v t a | _ => true end   (* refusing is fine; rows must be the right ones *)
-         end
-s    if revdb_denotes r v then want_commit r v t a
-    else match (norm_base r (fst v), snd v) with
-         | (BBranch b, []) =>                         (* dirty branch: `db/branch` is the branch's working set *)
-           match branch_working r b with
-           | Some w => match assoc t (d_schema w) with
-                       | Some cols => ans_eqb a (ARows cols (rows_of t (d_data w)))
-                       | None => is_error a
-                       end
-           | None => is_error a
-           end
-         | _ => match a with ARows _ _ | AHist _ _ => want_commit r v t a | _ => true end   (* refusing is fine; rows must be the right ones *)
-         end
-     if revdb_denotes r v then want_commit r v t a
-    else match (norm_base r (fst v), snd v) with
-         | (BBranch b, []) =>                         (* dirty branch: `db/branch` is the branch's working set *)
-           match branch_working r b with
-           | Some w => match assoc t (d_schema w) with
-                       | Some cols => ans_eqb a (ARows cols (rows_of t (d_data w)))
-                       | None => is_error a
-                       end
-           | None => is_error a
-           end
-         | _ => match a with ARows _ _ | AHist _ _ => want_commit r v t a | _ => true end   (* refusing is fine; rows must be the right ones *)
-         end
-(    if revdb_denotes r v then want_commit r v t a
-    else match (norm_base r (fst v), snd v) with
-         | (BBranch b, []) =>                         (* dirty branch: `db/branch` is the branch's working set *)
-           match branch_working r b with
-           | Some w => match assoc t (d_schema w) with
-                       | Some cols => ans_eqb a (ARows cols (rows_of t (d_data w)))
-                       | None => is_error a
-                       end
-           | None => is_error a
-           end
-         | _ => match a with ARows _ _ | AHist _ _ => want_commit r v t a | _ => true end   (* refusing is fine; rows must be the right ones *)
-         end
-r    if revdb_denotes r v then want_commit r v t a
-    else match (norm_base r (fst v), snd v) with
-         | (BBranch b, []) =>                         (* dirty branch: `db/branch` is the branch's working set *)
-           match branch_working r b with
-           | Some w => match assoc t (d_schema w) with
-                       | Some cols => ans_eqb a (ARows cols (rows_of t (d_data w)))
-                       | None => is_error a
-                       end
-           | None => is_error a
-           end
-         | _ => match a with ARows _ _ | AHist _ _ => want_commit r v t a | _ => true end   (* refusing is fine; rows must be the right ones *)
-         end
-_    if revdb_denotes r v then want_commit r v t a
-    else match (norm_base r (fst v), snd v) with
-         | (BBranch b, []) =>                         (* dirty branch: `db/branch` is the branch's working set *)
-           match branch_working r b with
-           | Some w => match assoc t (d_schema w) with
-                       | Some cols => ans_eqb a (ARows cols (rows_of t (d_data w)))
-                       | None => is_error a
-                       end
-           | None => is_error a
-           end
-         | _ => match a with ARows _ _ | AHist _ _ => want_commit r v t a | _ => true end   (* refusing is fine; rows must be the right ones *)
-         end
-h    if revdb_denotes r v then want_commit r v t a
-    else match (norm_base r (fst v), snd v) with
-         | (BBranch b, []) =>                         (* dirty branch: `db/branch` is the branch's working set *)
-           match branch_working r b with
-           | Some w => match assoc t (d_schema w) with
-                       | Some cols => ans_eqb a (ARows cols (rows_of t (d_data w)))
-                       | None => is_error a
-                       end
-           | None => is_error a
-           end
-         | _ => match a with ARows _ _ | AHist _ _ => want_commit r v t a | _ => true end   (* refusing is fine; rows must be the right ones *)
-         end
-i    if revdb_denotes r v then want_commit r v t a
-    else match (norm_base r (fst v), snd v) with
-         | (BBranch b, []) =>                         (* dirty branch: `db/branch` is the branch's working set *)
-           match branch_working r b with
-           | Some w => match assoc t (d_schema w) with
-                       | Some cols => ans_eqb a (ARows cols (rows_of t (d_data w)))
-                       | None => is_error a
-                       end
-           | None => is_error a
-           end
-         | _ => match a with ARows _ _ | AHist _ _ => want_commit r v t a | _ => true end   (* refusing is fine; rows must be the right ones *)
-         end
-s    if revdb_denotes r v then want_commit r v t a
-    else match (norm_base r (fst v), snd v) with
-         | (BBranch b, []) =>                         (* dirty branch: `db/branch` is the branch's working set *)
-           match branch_working r b with
-           | Some w => match assoc t (d_schema w) with
-                       | Some cols => ans_eqb a (ARows cols (rows_of t (d_data w)))
-                       | None => is_error a
-                       end
-           | None => is_error a
-           end
-         | _ => match a with ARows _ _ | AHist _ _ => want_commit r v t a | _ => true end   (* refusing is fine; rows must be the right ones *)
-         end
-t    if revdb_denotes r v then want_commit r v t a
-    else match (norm_base r (fst v), snd v) with
-         | (BBranch b, []) =>                         (* dirty branch: `db/branch` is the branch's working set *)
-           match branch_working r b with
-           | Some w => match assoc t (d_schema w) with
-                       | Some cols => ans_eqb a (ARows cols (rows_of t (d_data w)))
-                       | None => is_error a
-                       end
-           | None => is_error a
-           end
-         | _ => match a with ARows _ _ | AHist _ _ => want_commit r v t a | _ => true end   (* refusing is fine; rows must be the right ones *)
-         end
-     if revdb_denotes r v then want_commit r v t a
-    else match (norm_base r (fst v), snd v) with
-         | (BBranch b, []) =>                         (* dirty branch: `db/branch` is the branch's working set *)
-           match branch_working r b with
-           | Some w => match assoc t (d_schema w) with
-                       | Some cols => ans_eqb a (ARows cols (rows_of t (d_data w)))
-                       | None => is_error a
-                       end
-           | None => is_error a
-           end
-         | _ => match a with ARows _ _ | AHist _ _ => want_commit r v t a | _ => true end   (* refusing is fine; rows must be the right ones *)
-         end
-r    if revdb_denotes r v then want_commit r v t a
-    else match (norm_base r (fst v), snd v) with
-         | (BBranch b, []) =>                         (* dirty branch: `db/branch` is the branch's working set *)
-           match branch_working r b with
-           | Some w => match assoc t (d_schema w) with
-                       | Some cols => ans_eqb a (ARows cols (rows_of t (d_data w)))
-                       | None => is_error a
-                       end
-           | None => is_error a
-           end
-         | _ => match a with ARows _ _ | AHist _ _ => want_commit r v t a | _ => true end   (* refusing is fine; rows must be the right ones *)
-         end
-)    if revdb_denotes r v then want_commit r v t a
-    else match (norm_base r (fst v), snd v) with
-         | (BBranch b, []) =>                         (* dirty branch: `db/branch` is the branch's working set *)
-           match branch_working r b with
-           | Some w => match assoc t (d_schema w) with
-                       | Some cols => ans_eqb a (ARows cols (rows_of t (d_data w)))
-                       | None => is_error a
-                       end
-           | None => is_error a
-           end
-         | _ => match a with ARows _ _ | AHist _ _ => want_commit r v t a | _ => true end   (* refusing is fine; rows must be the right ones *)
-         end
-     if revdb_denotes r v then want_commit r v t a
-    else match (norm_base r (fst v), snd v) with
-         | (BBranch b, []) =>                         (* dirty branch: `db/branch` is the branch's working set *)
-           match branch_working r b with
-           | Some w => match assoc t (d_schema w) with
-                       | Some cols => ans_eqb a (ARows cols (rows_of t (d_data w)))
-                       | None => is_error a
-                       end
-           | None => is_error a
-           end
-         | _ => match a with ARows _ _ | AHist _ _ => want_commit r v t a | _ => true end   (* refusing is fine; rows must be the right ones *)
-         end
-t    if revdb_denotes r v then want_commit r v t a
-    else match (norm_base r (fst v), snd v) with
-         | (BBranch b, []) =>                         (* dirty branch: `db/branch` is the branch's working set *)
-           match branch_working r b with
-           | Some w => match assoc t (d_schema w) with
-                       | Some cols => ans_eqb a (ARows cols (rows_of t (d_data w)))
-                       | None => is_error a
-                       end
-           | None => is_error a
-           end
-         | _ => match a with ARows _ _ | AHist _ _ => want_commit r v t a | _ => true end   (* refusing is fine; rows must be the right ones *)
-         end
-g    if revdb_denotes r v then want_commit r v t a
-    else match (norm_base r (fst v), snd v) with
-         | (BBranch b, []) =>                         (* dirty branch: `db/branch` is the branch's working set *)
-           match branch_working r b with
-           | Some w => match assoc t (d_schema w) with
-                       | Some cols => ans_eqb a (ARows cols (rows_of t (d_data w)))
-                       | None => is_error a
-                       end
-           | None => is_error a
-           end
-         | _ => match a with ARows _ _ | AHist _ _ => want_commit r v t a | _ => true end   (* refusing is fine; rows must be the right ones *)
-         end
-t    if revdb_denotes r v then want_commit r v t a
-    else match (norm_base r (fst v), snd v) with
-         | (BBranch b, []) =>                         (* dirty branch: `db/branch` is the branch's working set *)
-           match branch_working r b with
-           | Some w => match assoc t (d_schema w) with
-                       | Some cols => ans_eqb a (ARows cols (rows_of t (d_data w)))
-                       | None => is_error a
-                       end
-           | None => is_error a
-           end
-         | _ => match a with ARows _ _ | AHist _ _ => want_commit r v t a | _ => true end   (* refusing is fine; rows must be the right ones *)
-         end
-     if revdb_denotes r v then want_commit r v t a
-    else match (norm_base r (fst v), snd v) with
-         | (BBranch b, []) =>                         (* dirty branch: `db/branch` is the branch's working set *)
-           match branch_working r b with
-           | Some w => match assoc t (d_schema w) with
-                       | Some cols => ans_eqb a (ARows cols (rows_of t (d_data w)))
-                       | None => is_error a
-                       end
-           | None => is_error a
-           end
-         | _ => match a with ARows _ _ | AHist _ _ => want_commit r v t a | _ => true end   (* refusing is fine; rows must be the right ones *)
-         end
-h    if revdb_denotes r v then want_commit r v t a
-    else match (norm_base r (fst v), snd v) with
-         | (BBranch b, []) =>                         (* dirty branch: `db/branch` is the branch's working set *)
-           match branch_working r b with
-           | Some w => match assoc t (d_schema w) with
-                       | Some cols => ans_eqb a (ARows cols (rows_of t (d_data w)))
-                       | None => is_error a
-                       end
-           | None => is_error a
-           end
-         | _ => match a with ARows _ _ | AHist _ _ => want_commit r v t a | _ => true end   (* refusing is fine; rows must be the right ones *)
-         end
-d    if revdb_denotes r v then want_commit r v t a
-    else match (norm_base r (fst v), snd v) with
-         | (BBranch b, []) =>                         (* dirty branch: `db/branch` is the branch's working set *)
-           match branch_working r b with
-           | Some w => match assoc t (d_schema w) with
-                       | Some cols => ans_eqb a (ARows cols (rows_of t (d_data w)))
-                       | None => is_error a
-                       end
-           | None => is_error a
-           end
-         | _ => match a with ARows _ _ | AHist _ _ => want_commit r v t a | _ => true end   (* refusing is fine; rows must be the right ones *)
-         end
-     if revdb_denotes r v then want_commit r v t a
-    else match (norm_base r (fst v), snd v) with
-         | (BBranch b, []) =>                         (* dirty branch: `db/branch` is the branch's working set *)
-           match branch_working r b with
-           | Some w => match assoc t (d_schema w) with
-                       | Some cols => ans_eqb a (ARows cols (rows_of t (d_data w)))
-                       | None => is_error a
-                       end
-           | None => is_error a
-           end
-         | _ => match a with ARows _ _ | AHist _ _ => want_commit r v t a | _ => true end   (* refusing is fine; rows must be the right ones *)
-         end
-t    if revdb_denotes r v then want_commit r v t a
-    else match (norm_base r (fst v), snd v) with
-         | (BBranch b, []) =>                         (* dirty branch: `db/branch` is the branch's working set *)
-           match branch_working r b with
-           | Some w => match assoc t (d_schema w) with
-                       | Some cols => ans_eqb a (ARows cols (rows_of t (d_data w)))
-                       | None => is_error a
-                       end
-           | None => is_error a
-           end
-         | _ => match a with ARows _ _ | AHist _ _ => want_commit r v t a | _ => true end   (* refusing is fine; rows must be the right ones *)
-         end
-)    if revdb_denotes r v then want_commit r v t a
-    else match (norm_base r (fst v), snd v) with
-         | (BBranch b, []) =>                         (* dirty branch: `db/branch` is the branch's working set *)
-           match branch_working r b with
-           | Some w => match assoc t (d_schema w) with
-                       | Some cols => ans_eqb a (ARows cols (rows_of t (d_data w)))
-                       | None => is_error a
-                       end
-           | None => is_error a
-           end
-         | _ => match a with ARows _ _ | AHist _ _ => want_commit r v t a | _ => true end   (* refusing is fine; rows must be the right ones *)
-         end
-)    if revdb_denotes r v then want_commit r v t a
-    else match (norm_base r (fst v), snd v) with
-         | (BBranch b, []) =>                         (* dirty branch: `db/branch` is the branch's working set *)
-           match branch_working r b with
-           | Some w => match assoc t (d_schema w) with
-                       | Some cols => ans_eqb a (ARows cols (rows_of t (d_data w)))
-                       | None => is_error a
-                       end
-           | None => is_error a
-           end
-         | _ => match a with ARows _ _ | AHist _ _ => want_commit r v t a | _ => true end   (* refusing is fine; rows must be the right ones *)
-         end
-
-    if revdb_denotes r v then want_commit r v t a
-    else match (norm_base r (fst v), snd v) with
-         | (BBranch b, []) =>                         (* dirty branch: `db/branch` is the branch's working set *)
-           match branch_working r b with
-           | Some w => match assoc t (d_schema w) with
-                       | Some cols => ans_eqb a (ARows cols (rows_of t (d_data w)))
-                       | None => is_error a
-                       end
-           | None => is_error a
-           end
-         | _ => match a with ARows _ _ | AHist _ _ => want_commit r v t a | _ => true end   (* refusing is fine; rows must be the right ones *)
-         end
-     if revdb_denotes r v then want_commit r v t a
-    else match (norm_base r (fst v), snd v) with
-         | (BBranch b, []) =>                         (* dirty branch: `db/branch` is the branch's working set *)
-           match branch_working r b with
-           | Some w => match assoc t (d_schema w) with
-                       | Some cols => ans_eqb a (ARows cols (rows_of t (d_data w)))
-                       | None => is_error a
-                       end
-           | None => is_error a
-           end
-         | _ => match a with ARows _ _ | AHist _ _ => want_commit r v t a | _ => true end   (* refusing is fine; rows must be the right ones *)
-         end
-     if revdb_denotes r v then want_commit r v t a
-    else match (norm_base r (fst v), snd v) with
-         | (BBranch b, []) =>                         (* dirty branch: `db/branch` is the branch's working set *)
-           match branch_working r b with
-           | Some w => match assoc t (d_schema w) with
-                       | Some cols => ans_eqb a (ARows cols (rows_of t (d_data w)))
-                       | None => is_error a
-                       end
-           | None => is_error a
-           end
-         | _ => match a with ARows _ _ | AHist _ _ => want_commit r v t a | _ => true end   (* refusing is fine; rows must be the right ones *)
-         end
-     if revdb_denotes r v then want_commit r v t a
-    else match (norm_base r (fst v), snd v) with
-         | (BBranch b, []) =>                         (* dirty branch: `db/branch` is the branch's working set *)
-           match branch_working r b with
-           | Some w => match assoc t (d_schema w) with
-                       | Some cols => ans_eqb a (ARows cols (rows_of t (d_data w)))
-                       | None => is_error a
-                       end
-           | None => is_error a
-           end
-         | _ => match a with ARows _ _ | AHist _ _ => want_commit r v t a | _ => true end   (* refusing is fine; rows must be the right ones *)
-         end
-     if revdb_denotes r v then want_commit r v t a
-    else match (norm_base r (fst v), snd v) with
-         | (BBranch b, []) =>                         (* dirty branch: `db/branch` is the branch's working set *)
-           match branch_working r b with
-           | Some w => match assoc t (d_schema w) with
-                       | Some cols => ans_eqb a (ARows cols (rows_of t (d_data w)))
-                       | None => is_error a
-                       end
-           | None => is_error a
-           end
-         | _ => match a with ARows _ _ | AHist _ _ => want_commit r v t a | _ => true end   (* refusing is fine; rows must be the right ones *)
-         end
-|    if revdb_denotes r v then want_commit r v t a
-    else match (norm_base r (fst v), snd v) with
-         | (BBranch b, []) =>                         (* dirty branch: `db/branch` is the branch's working set *)
-           match branch_working r b with
-           | Some w => match assoc t (d_schema w) with
-                       | Some cols => ans_eqb a (ARows cols (rows_of t (d_data w)))
-                       | None => is_error a
-                       end
-           | None => is_error a
-           end
-         | _ => match a with ARows _ _ | AHist _ _ => want_commit r v t a | _ => true end   (* refusing is fine; rows must be the right ones *)
-         end
-     if revdb_denotes r v then want_commit r v t a
-    else match (norm_base r (fst v), snd v) with
-         | (BBranch b, []) =>                         (* dirty branch: `db/branch` is the branch's working set *)
-           match branch_working r b with
-           | Some w => match assoc t (d_schema w) with
-                       | Some cols => ans_eqb a (ARows cols (rows_of t (d_data w)))
-                       | None => is_error a
-                       end
-           | None => is_error a
-           end
-         | _ => match a with ARows _ _ | AHist _ _ => want_commit r v t a | _ => true end   (* refusing is fine; rows must be the right ones *)
-         end
-_    if revdb_denotes r v then want_commit r v t a
-    else match (norm_base r (fst v), snd v) with
-         | (BBranch b, []) =>                         (* dirty branch: `db/branch` is the branch's working set *)
-           match branch_working r b with
-           | Some w => match assoc t (d_schema w) with
-                       | Some cols => ans_eqb a (ARows cols (rows_of t (d_data w)))
-                       | None => is_error a
-                       end
-           | None => is_error a
-           end
-         | _ => match a with ARows _ _ | AHist _ _ => want_commit r v t a | _ => true end   (* refusing is fine; rows must be the right ones *)
-         end
-,    if revdb_denotes r v then want_commit r v t a
-    else match (norm_base r (fst v), snd v) with
-         | (BBranch b, []) =>                         (* dirty branch: `db/branch` is the branch's working set *)
-           match branch_working r b with
-           | Some w => match assoc t (d_schema w) with
-                       | Some cols => ans_eqb a (ARows cols (rows_of t (d_data w)))
-                       | None => is_error a
-                       end
-           | None => is_error a
-           end
-         | _ => match a with ARows _ _ | AHist _ _ => want_commit r v t a | _ => true end   (* refusing is fine; rows must be the right ones *)
-         end
-     if revdb_denotes r v then want_commit r v t a
-    else match (norm_base r (fst v), snd v) with
-         | (BBranch b, []) =>                         (* dirty branch: `db/branch` is the branch's working set *)
-           match branch_working r b with
-           | Some w => match assoc t (d_schema w) with
-                       | Some cols => ans_eqb a (ARows cols (rows_of t (d_data w)))
-                       | None => is_error a
-                       end
-           | None => is_error a
-           end
-         | _ => match a with ARows _ _ | AHist _ _ => want_commit r v t a | _ => true end   (* refusing is fine; rows must be the right ones *)
-         end
-_    if revdb_denotes r v then want_commit r v t a
-    else match (norm_base r (fst v), snd v) with
-         | (BBranch b, []) =>                         (* dirty branch: `db/branch` is the branch's working set *)
-           match branch_working r b with
-           | Some w => match assoc t (d_schema w) with
-                       | Some cols => ans_eqb a (ARows cols (rows_of t (d_data w)))
-                       | None => is_error a
-                       end
-           | None => is_error a
-           end
-         | _ => match a with ARows _ _ | AHist _ _ => want_commit r v t a | _ => true end   (* refusing is fine; rows must be the right ones *)
-         end
-     if revdb_denotes r v then want_commit r v t a
-    else match (norm_base r (fst v), snd v) with
-         | (BBranch b, []) =>                         (* dirty branch: `db/branch` is the branch's working set *)
-           match branch_working r b with
-           | Some w => match assoc t (d_schema w) with
-                       | Some cols => ans_eqb a (ARows cols (rows_of t (d_data w)))
-                       | None => is_error a
-                       end
-           | None => is_error a
-           end
-         | _ => match a with ARows _ _ | AHist _ _ => want_commit r v t a | _ => true end   (* refusing is fine; rows must be the right ones *)
-         end
-=    if revdb_denotes r v then want_commit r v t a
-    else match (norm_base r (fst v), snd v) with
-         | (BBranch b, []) =>                         (* dirty branch: `db/branch` is the branch's working set *)
-           match branch_working r b with
-           | Some w => match assoc t (d_schema w) with
-                       | Some cols => ans_eqb a (ARows cols (rows_of t (d_data w)))
-                       | None => is_error a
-                       end
-           | None => is_error a
-           end
-         | _ => match a with ARows _ _ | AHist _ _ => want_commit r v t a | _ => true end   (* refusing is fine; rows must be the right ones *)
-         end
->    if revdb_denotes r v then want_commit r v t a
-    else match (norm_base r (fst v), snd v) with
-         | (BBranch b, []) =>                         (* dirty branch: `db/branch` is the branch's working set *)
-           match branch_working r b with
-           | Some w => match assoc t (d_schema w) with
-                       | Some cols => ans_eqb a (ARows cols (rows_of t (d_data w)))
-                       | None => is_error a
-                       end
-           | None => is_error a
-           end
-         | _ => match a with ARows _ _ | AHist _ _ => want_commit r v t a | _ => true end   (* refusing is fine; rows must be the right ones *)
-         end
-     if revdb_denotes r v then want_commit r v t a
-    else match (norm_base r (fst v), snd v) with
-         | (BBranch b, []) =>                         (* dirty branch: `db/branch` is the branch's working set *)
-           match branch_working r b with
-           | Some w => match assoc t (d_schema w) with
-                       | Some cols => ans_eqb a (ARows cols (rows_of t (d_data w)))
-                       | None => is_error a
-                       end
-           | None => is_error a
-           end
-         | _ => match a with ARows _ _ | AHist _ _ => want_commit r v t a | _ => true end   (* refusing is fine; rows must be the right ones *)
-         end
-i    if revdb_denotes r v then want_commit r v t a
-    else match (norm_base r (fst v), snd v) with
-         | (BBranch b, []) =>                         (* dirty branch: `db/branch` is the branch's working set *)
-           match branch_working r b with
-           | Some w => match assoc t (d_schema w) with
-                       | Some cols => ans_eqb a (ARows cols (rows_of t (d_data w)))
-                       | None => is_error a
-                       end
-           | None => is_error a
-           end
-         | _ => match a with ARows _ _ | AHist _ _ => want_commit r v t a | _ => true end   (* refusing is fine; rows must be the right ones *)
-         end
-s    if revdb_denotes r v then want_commit r v t a
-    else match (norm_base r (fst v), snd v) with
-         | (BBranch b, []) =>                         (* dirty branch: `db/branch` is the branch's working set *)
-           match branch_working r b with
-           | Some w => match assoc t (d_schema w) with
-                       | Some cols => ans_eqb a (ARows cols (rows_of t (d_data w)))
-                       | None => is_error a
-                       end
-           | None => is_error a
-           end
-         | _ => match a with ARows _ _ | AHist _ _ => want_commit r v t a | _ => true end   (* refusing is fine; rows must be the right ones *)
-         end
-_    if revdb_denotes r v then want_commit r v t a
-    else match (norm_base r (fst v), snd v) with
-         | (BBranch b, []) =>                         (* dirty branch: `db/branch` is the branch's working set *)
-           match branch_working r b with
-           | Some w => match assoc t (d_schema w) with
-                       | Some cols => ans_eqb a (ARows cols (rows_of t (d_data w)))
-                       | None => is_error a
-                       end
-           | None => is_error a
-           end
-         | _ => match a with ARows _ _ | AHist _ _ => want_commit r v t a | _ => true end   (* refusing is fine; rows must be the right ones *)
-         end
-e    if revdb_denotes r v then want_commit r v t a
-    else match (norm_base r (fst v), snd v) with
-         | (BBranch b, []) =>                         (* dirty branch: `db/branch` is the branch's working set *)
-           match branch_working r b with
-           | Some w => match assoc t (d_schema w) with
-                       | Some cols => ans_eqb a (ARows cols (rows_of t (d_data w)))
-                       | None => is_error a
-                       end
-           | None => is_error a
-           end
-         | _ => match a with ARows _ _ | AHist _ _ => want_commit r v t a | _ => true end   (* refusing is fine; rows must be the right ones *)
-         end
-r    if revdb_denotes r v then want_commit r v t a
-    else match (norm_base r (fst v), snd v) with
-         | (BBranch b, []) =>                         (* dirty branch: `db/branch` is the branch's working set *)
-           match branch_working r b with
-           | Some w => match assoc t (d_schema w) with
-                       | Some cols => ans_eqb a (ARows cols (rows_of t (d_data w)))
-                       | None => is_error a
-                       end
-           | None => is_error a
-           end
-         | _ => match a with ARows _ _ | AHist _ _ => want_commit r v t a | _ => true end   (* refusing is fine; rows must be the right ones *)
-         end
-r    if revdb_denotes r v then want_commit r v t a
-    else match (norm_base r (fst v), snd v) with
-         | (BBranch b, []) =>                         (* dirty branch: `db/branch` is the branch's working set *)
-           match branch_working r b with
-           | Some w => match assoc t (d_schema w) with
-                       | Some cols => ans_eqb a (ARows cols (rows_of t (d_data w)))
-                       | None => is_error a
-                       end
-           | None => is_error a
-           end
-         | _ => match a with ARows _ _ | AHist _ _ => want_commit r v t a | _ => true end   (* refusing is fine; rows must be the right ones *)
-         end
-o    if revdb_denotes r v then want_commit r v t a
-    else match (norm_base r (fst v), snd v) with
-         | (BBranch b, []) =>                         (* dirty branch: `db/branch` is the branch's working set *)
-           match branch_working r b with
-           | Some w => match assoc t (d_schema w) with
-                       | Some cols => ans_eqb a (ARows cols (rows_of t (d_data w)))
-                       | None => is_error a
-                       end
-           | None => is_error a
-           end
-         | _ => match a with ARows _ _ | AHist _ _ => want_commit r v t a | _ => true end   (* refusing is fine; rows must be the right ones *)
-         end
-r    if revdb_denotes r v then want_commit r v t a
-    else match (norm_base r (fst v), snd v) with
-         | (BBranch b, []) =>                         (* dirty branch: `db/branch` is the branch's working set *)
-           match branch_working r b with
-           | Some w => match assoc t (d_schema w) with
-                       | Some cols => ans_eqb a (ARows cols (rows_of t (d_data w)))
-                       | None => is_error a
-                       end
-           | None => is_error a
-           end
-         | _ => match a with ARows _ _ | AHist _ _ => want_commit r v t a | _ => true end   (* refusing is fine; rows must be the right ones *)
-         end
-     if revdb_denotes r v then want_commit r v t a
-    else match (norm_base r (fst v), snd v) with
-         | (BBranch b, []) =>                         (* dirty branch: `db/branch` is the branch's working set *)
-           match branch_working r b with
-           | Some w => match assoc t (d_schema w) with
-                       | Some cols => ans_eqb a (ARows cols (rows_of t (d_data w)))
-                       | None => is_error a
-                       end
-           | None => is_error a
-           end
-         | _ => match a with ARows _ _ | AHist _ _ => want_commit r v t a | _ => true end   (* refusing is fine; rows must be the right ones *)
-         end
-a    if revdb_denotes r v then want_commit r v t a
-    else match (norm_base r (fst v), snd v) with
-         | (BBranch b, []) =>                         (* dirty branch: `db/branch` is the branch's working set *)
-           match branch_working r b with
-           | Some w => match assoc t (d_schema w) with
-                       | Some cols => ans_eqb a (ARows cols (rows_of t (d_data w)))
-                       | None => is_error a
-                       end
-           | None => is_error a
-           end
-         | _ => match a with ARows _ _ | AHist _ _ => want_commit r v t a | _ => true end   (* refusing is fine; rows must be the right ones *)
-         end
-
-    if revdb_denotes r v then want_commit r v t a
-    else match (norm_base r (fst v), snd v) with
-         | (BBranch b, []) =>                         (* dirty branch: `db/branch` is the branch's working set *)
-           match branch_working r b with
-           | Some w => match assoc t (d_schema w) with
-                       | Some cols => ans_eqb a (ARows cols (rows_of t (d_data w)))
-                       | None => is_error a
-                       end
-           | None => is_error a
-           end
-         | _ => match a with ARows _ _ | AHist _ _ => want_commit r v t a | _ => true end   (* refusing is fine; rows must be the right ones *)
-         end
-     if revdb_denotes r v then want_commit r v t a
-    else match (norm_base r (fst v), snd v) with
-         | (BBranch b, []) =>                         (* dirty branch: `db/branch` is the branch's working set *)
-           match branch_working r b with
-           | Some w => match assoc t (d_schema w) with
-                       | Some cols => ans_eqb a (ARows cols (rows_of t (d_data w)))
-                       | None => is_error a
-                       end
-           | None => is_error a
-           end
-         | _ => match a with ARows _ _ | AHist _ _ => want_commit r v t a | _ => true end   (* refusing is fine; rows must be the right ones *)
-         end
-     if revdb_denotes r v then want_commit r v t a
-    else match (norm_base r (fst v), snd v) with
-         | (BBranch b, []) =>                         (* dirty branch: `db/branch` is the branch's working set *)
-           match branch_working r b with
-           | Some w => match assoc t (d_schema w) with
-                       | Some cols => ans_eqb a (ARows cols (rows_of t (d_data w)))
-                       | None => is_error a
-                       end
-           | None => is_error a
-           end
-         | _ => match a with ARows _ _ | AHist _ _ => want_commit r v t a | _ => true end   (* refusing is fine; rows must be the right ones *)
-         end
-     if revdb_denotes r v then want_commit r v t a
-    else match (norm_base r (fst v), snd v) with
-         | (BBranch b, []) =>                         (* dirty branch: `db/branch` is the branch's working set *)
-           match branch_working r b with
-           | Some w => match assoc t (d_schema w) with
-                       | Some cols => ans_eqb a (ARows cols (rows_of t (d_data w)))
-                       | None => is_error a
-                       end
-           | None => is_error a
-           end
-         | _ => match a with ARows _ _ | AHist _ _ => want_commit r v t a | _ => true end   (* refusing is fine; rows must be the right ones *)
-         end
-     if revdb_denotes r v then want_commit r v t a
-    else match (norm_base r (fst v), snd v) with
-         | (BBranch b, []) =>                         (* dirty branch: `db/branch` is the branch's working set *)
-           match branch_working r b with
-           | Some w => match assoc t (d_schema w) with
-                       | Some cols => ans_eqb a (ARows cols (rows_of t (d_data w)))
-                       | None => is_error a
-                       end
-           | None => is_error a
-           end
-         | _ => match a with ARows _ _ | AHist _ _ => want_commit r v t a | _ => true end   (* refusing is fine; rows must be the right ones *)
-         end
-e    if revdb_denotes r v then want_commit r v t a
-    else match (norm_base r (fst v), snd v) with
-         | (BBranch b, []) =>                         (* dirty branch: `db/branch` is the branch's working set *)
-           match branch_working r b with
-           | Some w => match assoc t (d_schema w) with
-                       | Some cols => ans_eqb a (ARows cols (rows_of t (d_data w)))
-                       | None => is_error a
-                       end
-           | None => is_error a
-           end
-         | _ => match a with ARows _ _ | AHist _ _ => want_commit r v t a | _ => true end   (* refusing is fine; rows must be the right ones *)
-         end
-n    if revdb_denotes r v then want_commit r v t a
-    else match (norm_base r (fst v), snd v) with
-         | (BBranch b, []) =>                         (* dirty branch: `db/branch` is the branch's working set *)
-           match branch_working r b with
-           | Some w => match assoc t (d_schema w) with
-                       | Some cols => ans_eqb a (ARows cols (rows_of t (d_data w)))
-                       | None => is_error a
-                       end
-           | None => is_error a
-           end
-         | _ => match a with ARows _ _ | AHist _ _ => want_commit r v t a | _ => true end   (* refusing is fine; rows must be the right ones *)
-         end
-d    if revdb_denotes r v then want_commit r v t a
-    else match (norm_base r (fst v), snd v) with
-         | (BBranch b, []) =>                         (* dirty branch: `db/branch` is the branch's working set *)
-           match branch_working r b with
-           | Some w => match assoc t (d_schema w) with
-                       | Some cols => ans_eqb a (ARows cols (rows_of t (d_data w)))
-                       | None => is_error a
-                       end
-           | None => is_error a
-           end
-         | _ => match a with ARows _ _ | AHist _ _ => want_commit r v t a | _ => true end   (* refusing is fine; rows must be the right ones *)
-         end
-
-    if revdb_denotes r v then want_commit r v t a
-    else match (norm_base r (fst v), snd v) with
-         | (BBranch b, []) =>                         (* dirty branch: `db/branch` is the branch's working set *)
-           match branch_working r b with
-           | Some w => match assoc t (d_schema w) with
-                       | Some cols => ans_eqb a (ARows cols (rows_of t (d_data w)))
-                       | None => is_error a
-                       end
-           | None => is_error a
-           end
-         | _ => match a with ARows _ _ | AHist _ _ => want_commit r v t a | _ => true end   (* refusing is fine; rows must be the right ones *)
-         end
-     if revdb_denotes r v then want_commit r v t a
-    else match (norm_base r (fst v), snd v) with
-         | (BBranch b, []) =>                         (* dirty branch: `db/branch` is the branch's working set *)
-           match branch_working r b with
-           | Some w => match assoc t (d_schema w) with
-                       | Some cols => ans_eqb a (ARows cols (rows_of t (d_data w)))
-                       | None => is_error a
-                       end
-           | None => is_error a
-           end
-         | _ => match a with ARows _ _ | AHist _ _ => want_commit r v t a | _ => true end   (* refusing is fine; rows must be the right ones *)
-         end
-     if revdb_denotes r v then want_commit r v t a
-    else match (norm_base r (fst v), snd v) with
-         | (BBranch b, []) =>                         (* dirty branch: `db/branch` is the branch's working set *)
-           match branch_working r b with
-           | Some w => match assoc t (d_schema w) with
-                       | Some cols => ans_eqb a (ARows cols (rows_of t (d_data w)))
-                       | None => is_error a
-                       end
-           | None => is_error a
-           end
-         | _ => match a with ARows _ _ | AHist _ _ => want_commit r v t a | _ => true end   (* refusing is fine; rows must be the right ones *)
-         end
-e    if revdb_denotes r v then want_commit r v t a
-    else match (norm_base r (fst v), snd v) with
-         | (BBranch b, []) =>                         (* dirty branch: `db/branch` is the branch's working set *)
-           match branch_working r b with
-           | Some w => match assoc t (d_schema w) with
-                       | Some cols => ans_eqb a (ARows cols (rows_of t (d_data w)))
-                       | None => is_error a
-                       end
-           | None => is_error a
-           end
-         | _ => match a with ARows _ _ | AHist _ _ => want_commit r v t a | _ => true end   (* refusing is fine; rows must be the right ones *)
-         end
-n    if revdb_denotes r v then want_commit r v t a
-    else match (norm_base r (fst v), snd v) with
-         | (BBranch b, []) =>                         (* dirty branch: `db/branch` is the branch's working set *)
-           match branch_working r b with
-           | Some w => match assoc t (d_schema w) with
-                       | Some cols => ans_eqb a (ARows cols (rows_of t (d_data w)))
-                       | None => is_error a
-                       end
-           | None => is_error a
-           end
-         | _ => match a with ARows _ _ | AHist _ _ => want_commit r v t a | _ => true end   (* refusing is fine; rows must be the right ones *)
-         end
-d    if revdb_denotes r v then want_commit r v t a
-    else match (norm_base r (fst v), snd v) with
-         | (BBranch b, []) =>                         (* dirty branch: `db/branch` is the branch's working set *)
-           match branch_working r b with
-           | Some w => match assoc t (d_schema w) with
-                       | Some cols => ans_eqb a (ARows cols (rows_of t (d_data w)))
-                       | None => is_error a
-                       end
-           | None => is_error a
-           end
-         | _ => match a with ARows _ _ | AHist _ _ => want_commit r v t a | _ => true end   (* refusing is fine; rows must be the right ones *)
-         end
-.    if revdb_denotes r v then want_commit r v t a
-    else match (norm_base r (fst v), snd v) with
-         | (BBranch b, []) =>                         (* dirty branch: `db/branch` is the branch's working set *)
-           match branch_working r b with
-           | Some w => match assoc t (d_schema w) with
-                       | Some cols => ans_eqb a (ARows cols (rows_of t (d_data w)))
-                       | None => is_error a
-                       end
-           | None => is_error a
-           end
-         | _ => match a with ARows _ _ | AHist _ _ => want_commit r v t a | _ => true end   (* refusing is fine; rows must be the right ones *)
-         end
-
-    if revdb_denotes r v then want_commit r v t a
-    else match (norm_base r (fst v), snd v) with
-         | (BBranch b, []) =>                         (* dirty branch: `db/branch` is the branch's working set *)
-           match branch_working r b with
-           | Some w => match assoc t (d_schema w) with
-                       | Some cols => ans_eqb a (ARows cols (rows_of t (d_data w)))
-                       | None => is_error a
-                       end
-           | None => is_error a
-           end
-         | _ => match a with ARows _ _ | AHist _ _ => want_commit r v t a | _ => true end   (* refusing is fine; rows must be the right ones *)
-         end
-
-    if revdb_denotes r v then want_commit r v t a
-    else match (norm_base r (fst v), snd v) with
-         | (BBranch b, []) =>                         (* dirty branch: `db/branch` is the branch's working set *)
-           match branch_working r b with
-           | Some w => match assoc t (d_schema w) with
-                       | Some cols => ans_eqb a (ARows cols (rows_of t (d_data w)))
-                       | None => is_error a
-                       end
-           | None => is_error a
-           end
-         | _ => match a with ARows _ _ | AHist _ _ => want_commit r v t a | _ => true end   (* refusing is fine; rows must be the right ones *)
-         end
-F    if revdb_denotes r v then want_commit r v t a
-    else match (norm_base r (fst v), snd v) with
-         | (BBranch b, []) =>                         (* dirty branch: `db/branch` is the branch's working set *)
-           match branch_working r b with
-           | Some w => match assoc t (d_schema w) with
-                       | Some cols => ans_eqb a (ARows cols (rows_of t (d_data w)))
-                       | None => is_error a
-                       end
-           | None => is_error a
-           end
-         | _ => match a with ARows _ _ | AHist _ _ => want_commit r v t a | _ => true end   (* refusing is fine; rows must be the right ones *)
-         end
-i    if revdb_denotes r v then want_commit r v t a
-    else match (norm_base r (fst v), snd v) with
-         | (BBranch b, []) =>                         (* dirty branch: `db/branch` is the branch's working set *)
-           match branch_working r b with
-           | Some w => match assoc t (d_schema w) with
-                       | Some cols => ans_eqb a (ARows cols (rows_of t (d_data w)))
-                       | None => is_error a
-                       end
-           | None => is_error a
-           end
-         | _ => match a with ARows _ _ | AHist _ _ => want_commit r v t a | _ => true end   (* refusing is fine; rows must be the right ones *)
-         end
-x    if revdb_denotes r v then want_commit r v t a
-    else match (norm_base r (fst v), snd v) with
-         | (BBranch b, []) =>                         (* dirty branch: `db/branch` is the branch's working set *)
-           match branch_working r b with
-           | Some w => match assoc t (d_schema w) with
-                       | Some cols => ans_eqb a (ARows cols (rows_of t (d_data w)))
-                       | None => is_error a
-                       end
-           | None => is_error a
-           end
-         | _ => match a with ARows _ _ | AHist _ _ => want_commit r v t a | _ => true end   (* refusing is fine; rows must be the right ones *)
-         end
-p    if revdb_denotes r v then want_commit r v t a
-    else match (norm_base r (fst v), snd v) with
-         | (BBranch b, []) =>                         (* dirty branch: `db/branch` is the branch's working set *)
-           match branch_working r b with
-           | Some w => match assoc t (d_schema w) with
-                       | Some cols => ans_eqb a (ARows cols (rows_of t (d_data w)))
-                       | None => is_error a
-                       end
-           | None => is_error a
-           end
-         | _ => match a with ARows _ _ | AHist _ _ => want_commit r v t a | _ => true end   (* refusing is fine; rows must be the right ones *)
-         end
-o    if revdb_denotes r v then want_commit r v t a
-    else match (norm_base r (fst v), snd v) with
-         | (BBranch b, []) =>                         (* dirty branch: `db/branch` is the branch's working set *)
-           match branch_working r b with
-           | Some w => match assoc t (d_schema w) with
-                       | Some cols => ans_eqb a (ARows cols (rows_of t (d_data w)))
-                       | None => is_error a
-                       end
-           | None => is_error a
-           end
-         | _ => match a with ARows _ _ | AHist _ _ => want_commit r v t a | _ => true end   (* refusing is fine; rows must be the right ones *)
-         end
-i    if revdb_denotes r v then want_commit r v t a
-    else match (norm_base r (fst v), snd v) with
-         | (BBranch b, []) =>                         (* dirty branch: `db/branch` is the branch's working set *)
-           match branch_working r b with
-           | Some w => match assoc t (d_schema w) with
-                       | Some cols => ans_eqb a (ARows cols (rows_of t (d_data w)))
-                       | None => is_error a
-                       end
-           | None => is_error a
-           end
-         | _ => match a with ARows _ _ | AHist _ _ => want_commit r v t a | _ => true end   (* refusing is fine; rows must be the right ones *)
-         end
-n    if revdb_denotes r v then want_commit r v t a
-    else match (norm_base r (fst v), snd v) with
-         | (BBranch b, []) =>                         (* dirty branch: `db/branch` is the branch's working set *)
-           match branch_working r b with
-           | Some w => match assoc t (d_schema w) with
-                       | Some cols => ans_eqb a (ARows cols (rows_of t (d_data w)))
-                       | None => is_error a
-                       end
-           | None => is_error a
-           end
-         | _ => match a with ARows _ _ | AHist _ _ => want_commit r v t a | _ => true end   (* refusing is fine; rows must be the right ones *)
-         end
-t    if revdb_denotes r v then want_commit r v t a
-    else match (norm_base r (fst v), snd v) with
-         | (BBranch b, []) =>                         (* dirty branch: `db/branch` is the branch's working set *)
-           match branch_working r b with
-           | Some w => match assoc t (d_schema w) with
-                       | Some cols => ans_eqb a (ARows cols (rows_of t (d_data w)))
-                       | None => is_error a
-                       end
-           | None => is_error a
-           end
-         | _ => match a with ARows _ _ | AHist _ _ => want_commit r v t a | _ => true end   (* refusing is fine; rows must be the right ones *)
-         end
-     if revdb_denotes r v then want_commit r v t a
-    else match (norm_base r (fst v), snd v) with
-         | (BBranch b, []) =>                         (* dirty branch: `db/branch` is the branch's working set *)
-           match branch_working r b with
-           | Some w => match assoc t (d_schema w) with
-                       | Some cols => ans_eqb a (ARows cols (rows_of t (d_data w)))
-                       | None => is_error a
-                       end
-           | None => is_error a
-           end
-         | _ => match a with ARows _ _ | AHist _ _ => want_commit r v t a | _ => true end   (* refusing is fine; rows must be the right ones *)
-         end
-p    if revdb_denotes r v then want_commit r v t a
-    else match (norm_base r (fst v), snd v) with
-         | (BBranch b, []) =>                         (* dirty branch: `db/branch` is the branch's working set *)
-           match branch_working r b with
-           | Some w => match assoc t (d_schema w) with
-                       | Some cols => ans_eqb a (ARows cols (rows_of t (d_data w)))
-                       | None => is_error a
-                       end
-           | None => is_error a
-           end
-         | _ => match a with ARows _ _ | AHist _ _ => want_commit r v t a | _ => true end   (* refusing is fine; rows must be the right ones *)
-         end
-r    if revdb_denotes r v then want_commit r v t a
-    else match (norm_base r (fst v), snd v) with
-         | (BBranch b, []) =>                         (* dirty branch: `db/branch` is the branch's working set *)
-           match branch_working r b with
-           | Some w => match assoc t (d_schema w) with
-                       | Some cols => ans_eqb a (ARows cols (rows_of t (d_data w)))
-                       | None => is_error a
-                       end
-           | None => is_error a
-           end
-         | _ => match a with ARows _ _ | AHist _ _ => want_commit r v t a | _ => true end   (* refusing is fine; rows must be the right ones *)
-         end
-o    if revdb_denotes r v then want_commit r v t a
-    else match (norm_base r (fst v), snd v) with
-         | (BBranch b, []) =>                         (* dirty branch: `db/branch` is the branch's working set *)
-           match branch_working r b with
-           | Some w => match assoc t (d_schema w) with
-                       | Some cols => ans_eqb a (ARows cols (rows_of t (d_data w)))
-                       | None => is_error a
-                       end
-           | None => is_error a
-           end
-         | _ => match a with ARows _ _ | AHist _ _ => want_commit r v t a | _ => true end   (* refusing is fine; rows must be the right ones *)
-         end
-p    if revdb_denotes r v then want_commit r v t a
-    else match (norm_base r (fst v), snd v) with
-         | (BBranch b, []) =>                         (* dirty branch: `db/branch` is the branch's working set *)
-           match branch_working r b with
-           | Some w => match assoc t (d_schema w) with
-                       | Some cols => ans_eqb a (ARows cols (rows_of t (d_data w)))
-                       | None => is_error a
-                       end
-           | None => is_error a
-           end
-         | _ => match a with ARows _ _ | AHist _ _ => want_commit r v t a | _ => true end   (* refusing is fine; rows must be the right ones *)
-         end
-_    if revdb_denotes r v then want_commit r v t a
-    else match (norm_base r (fst v), snd v) with
-         | (BBranch b, []) =>                         (* dirty branch: `db/branch` is the branch's working set *)
-           match branch_working r b with
-           | Some w => match assoc t (d_schema w) with
-                       | Some cols => ans_eqb a (ARows cols (rows_of t (d_data w)))
-                       | None => is_error a
-                       end
-           | None => is_error a
-           end
-         | _ => match a with ARows _ _ | AHist _ _ => want_commit r v t a | _ => true end   (* refusing is fine; rows must be the right ones *)
-         end
-a    if revdb_denotes r v then want_commit r v t a
-    else match (norm_base r (fst v), snd v) with
-         | (BBranch b, []) =>                         (* dirty branch: `db/branch` is the branch's working set *)
-           match branch_working r b with
-           | Some w => match assoc t (d_schema w) with
-                       | Some cols => ans_eqb a (ARows cols (rows_of t (d_data w)))
-                       | None => is_error a
-                       end
-           | None => is_error a
-           end
-         | _ => match a with ARows _ _ | AHist _ _ => want_commit r v t a | _ => true end   (* refusing is fine; rows must be the right ones *)
-         end
-l    if revdb_denotes r v then want_commit r v t a
-    else match (norm_base r (fst v), snd v) with
-         | (BBranch b, []) =>                         (* dirty branch: `db/branch` is the branch's working set *)
-           match branch_working r b with
-           | Some w => match assoc t (d_schema w) with
-                       | Some cols => ans_eqb a (ARows cols (rows_of t (d_data w)))
-                       | None => is_error a
-                       end
-           | None => is_error a
-           end
-         | _ => match a with ARows _ _ | AHist _ _ => want_commit r v t a | _ => true end   (* refusing is fine; rows must be the right ones *)
-         end
-l    if revdb_denotes r v then want_commit r v t a
-    else match (norm_base r (fst v), snd v) with
-         | (BBranch b, []) =>                         (* dirty branch: `db/branch` is the branch's working set *)
-           match branch_working r b with
-           | Some w => match assoc t (d_schema w) with
-                       | Some cols => ans_eqb a (ARows cols (rows_of t (d_data w)))
-                       | None => is_error a
-                       end
-           | None => is_error a
-           end
-         | _ => match a with ARows _ _ | AHist _ _ => want_commit r v t a | _ => true end   (* refusing is fine; rows must be the right ones *)
-         end
-     if revdb_denotes r v then want_commit r v t a
-    else match (norm_base r (fst v), snd v) with
-         | (BBranch b, []) =>                         (* dirty branch: `db/branch` is the branch's working set *)
-           match branch_working r b with
-           | Some w => match assoc t (d_schema w) with
-                       | Some cols => ans_eqb a (ARows cols (rows_of t (d_data w)))
-                       | None => is_error a
-                       end
-           | None => is_error a
-           end
-         | _ => match a with ARows _ _ | AHist _ _ => want_commit r v t a | _ => true end   (* refusing is fine; rows must be the right ones *)
-         end
-(    if revdb_denotes r v then want_commit r v t a
-    else match (norm_base r (fst v), snd v) with
-         | (BBranch b, []) =>                         (* dirty branch: `db/branch` is the branch's working set *)
-           match branch_working r b with
-           | Some w => match assoc t (d_schema w) with
-                       | Some cols => ans_eqb a (ARows cols (rows_of t (d_data w)))
-                       | None => is_error a
-                       end
-           | None => is_error a
-           end
-         | _ => match a with ARows _ _ | AHist _ _ => want_commit r v t a | _ => true end   (* refusing is fine; rows must be the right ones *)
-         end
-r    if revdb_denotes r v then want_commit r v t a
-    else match (norm_base r (fst v), snd v) with
-         | (BBranch b, []) =>                         (* dirty branch: `db/branch` is the branch's working set *)
-           match branch_working r b with
-           | Some w => match assoc t (d_schema w) with
-                       | Some cols => ans_eqb a (ARows cols (rows_of t (d_data w)))
-                       | None => is_error a
-                       end
-           | None => is_error a
-           end
-         | _ => match a with ARows _ _ | AHist _ _ => want_commit r v t a | _ => true end   (* refusing is fine; rows must be the right ones *)
-         end
-     if revdb_denotes r v then want_commit r v t a
-    else match (norm_base r (fst v), snd v) with
-         | (BBranch b, []) =>                         (* dirty branch: `db/branch` is the branch's working set *)
-           match branch_working r b with
-           | Some w => match assoc t (d_schema w) with
-                       | Some cols => ans_eqb a (ARows cols (rows_of t (d_data w)))
-                       | None => is_error a
-                       end
-           | None => is_error a
-           end
-         | _ => match a with ARows _ _ | AHist _ _ => want_commit r v t a | _ => true end   (* refusing is fine; rows must be the right ones *)
-         end
-:    if revdb_denotes r v then want_commit r v t a
-    else match (norm_base r (fst v), snd v) with
-         | (BBranch b, []) =>                         (* dirty branch: `db/branch` is the branch's working set *)
-           match branch_working r b with
-           | Some w => match assoc t (d_schema w) with
-                       | Some cols => ans_eqb a (ARows cols (rows_of t (d_data w)))
-                       | None => is_error a
-                       end
-           | None => is_error a
-           end
-         | _ => match a with ARows _ _ | AHist _ _ => want_commit r v t a | _ => true end   (* refusing is fine; rows must be the right ones *)
-         end
-     if revdb_denotes r v then want_commit r v t a
-    else match (norm_base r (fst v), snd v) with
-         | (BBranch b, []) =>                         (* dirty branch: `db/branch` is the branch's working set *)
-           match branch_working r b with
-           | Some w => match assoc t (d_schema w) with
-                       | Some cols => ans_eqb a (ARows cols (rows_of t (d_data w)))
-                       | None => is_error a
-                       end
-           | None => is_error a
-           end
-         | _ => match a with ARows _ _ | AHist _ _ => want_commit r v t a | _ => true end   (* refusing is fine; rows must be the right ones *)
-         end
-r    if revdb_denotes r v then want_commit r v t a
-    else match (norm_base r (fst v), snd v) with
-         | (BBranch b, []) =>                         (* dirty branch: `db/branch` is the branch's working set *)
-           match branch_working r b with
-           | Some w => match assoc t (d_schema w) with
-                       | Some cols => ans_eqb a (ARows cols (rows_of t (d_data w)))
-                       | None => is_error a
-                       end
-           | None => is_error a
-           end
-         | _ => match a with ARows _ _ | AHist _ _ => want_commit r v t a | _ => true end   (* refusing is fine; rows must be the right ones *)
-         end
-e    if revdb_denotes r v then want_commit r v t a
-    else match (norm_base r (fst v), snd v) with
-         | (BBranch b, []) =>                         (* dirty branch: `db/branch` is the branch's working set *)
-           match branch_working r b with
-           | Some w => match assoc t (d_schema w) with
-                       | Some cols => ans_eqb a (ARows cols (rows_of t (d_data w)))
-                       | None => is_error a
-                       end
-           | None => is_error a
-           end
-         | _ => match a with ARows _ _ | AHist _ _ => want_commit r v t a | _ => true end   (* refusing is fine; rows must be the right ones *)
-         end
-p    if revdb_denotes r v then want_commit r v t a
-    else match (norm_base r (fst v), snd v) with
-         | (BBranch b, []) =>                         (* dirty branch: `db/branch` is the branch's working set *)
-           match branch_working r b with
-           | Some w => match assoc t (d_schema w) with
-                       | Some cols => ans_eqb a (ARows cols (rows_of t (d_data w)))
-                       | None => is_error a
-                       end
-           | None => is_error a
-           end
-         | _ => match a with ARows _ _ | AHist _ _ => want_commit r v t a | _ => true end   (* refusing is fine; rows must be the right ones *)
-         end
-o    if revdb_denotes r v then want_commit r v t a
-    else match (norm_base r (fst v), snd v) with
-         | (BBranch b, []) =>                         (* dirty branch: `db/branch` is the branch's working set *)
-           match branch_working r b with
-           | Some w => match assoc t (d_schema w) with
-                       | Some cols => ans_eqb a (ARows cols (rows_of t (d_data w)))
-                       | None => is_error a
-                       end
-           | None => is_error a
-           end
-         | _ => match a with ARows _ _ | AHist _ _ => want_commit r v t a | _ => true end   (* refusing is fine; rows must be the right ones *)
-         end
-)    if revdb_denotes r v then want_commit r v t a
-    else match (norm_base r (fst v), snd v) with
-         | (BBranch b, []) =>                         (* dirty branch: `db/branch` is the branch's working set *)
-           match branch_working r b with
-           | Some w => match assoc t (d_schema w) with
-                       | Some cols => ans_eqb a (ARows cols (rows_of t (d_data w)))
-                       | None => is_error a
-                       end
-           | None => is_error a
-           end
-         | _ => match a with ARows _ _ | AHist _ _ => want_commit r v t a | _ => true end   (* refusing is fine; rows must be the right ones *)
-         end
-     if revdb_denotes r v then want_commit r v t a
-    else match (norm_base r (fst v), snd v) with
-         | (BBranch b, []) =>                         (* dirty branch: `db/branch` is the branch's working set *)
-           match branch_working r b with
-           | Some w => match assoc t (d_schema w) with
-                       | Some cols => ans_eqb a (ARows cols (rows_of t (d_data w)))
-                       | None => is_error a
-                       end
-           | None => is_error a
-           end
-         | _ => match a with ARows _ _ | AHist _ _ => want_commit r v t a | _ => true end   (* refusing is fine; rows must be the right ones *)
-         end
-(    if revdb_denotes r v then want_commit r v t a
-    else match (norm_base r (fst v), snd v) with
-         | (BBranch b, []) =>                         (* dirty branch: `db/branch` is the branch's working set *)
-           match branch_working r b with
-           | Some w => match assoc t (d_schema w) with
-                       | Some cols => ans_eqb a (ARows cols (rows_of t (d_data w)))
-                       | None => is_error a
-                       end
-           | None => is_error a
-           end
-         | _ => match a with ARows _ _ | AHist _ _ => want_commit r v t a | _ => true end   (* refusing is fine; rows must be the right ones *)
-         end
-q    if revdb_denotes r v then want_commit r v t a
-    else match (norm_base r (fst v), snd v) with
-         | (BBranch b, []) =>                         (* dirty branch: `db/branch` is the branch's working set *)
-           match branch_working r b with
-           | Some w => match assoc t (d_schema w) with
-                       | Some cols => ans_eqb a (ARows cols (rows_of t (d_data w)))
-                       | None => is_error a
-                       end
-           | None => is_error a
-           end
-         | _ => match a with ARows _ _ | AHist _ _ => want_commit r v t a | _ => true end   (* refusing is fine; rows must be the right ones *)
-         end
-s    if revdb_denotes r v then want_commit r v t a
-    else match (norm_base r (fst v), snd v) with
-         | (BBranch b, []) =>                         (* dirty branch: `db/branch` is the branch's working set *)
-           match branch_working r b with
-           | Some w => match assoc t (d_schema w) with
-                       | Some cols => ans_eqb a (ARows cols (rows_of t (d_data w)))
-                       | None => is_error a
-                       end
-           | None => is_error a
-           end
-         | _ => match a with ARows _ _ | AHist _ _ => want_commit r v t a | _ => true end   (* refusing is fine; rows must be the right ones *)
-         end
-     if revdb_denotes r v then want_commit r v t a
-    else match (norm_base r (fst v), snd v) with
-         | (BBranch b, []) =>                         (* dirty branch: `db/branch` is the branch's working set *)
-           match branch_working r b with
-           | Some w => match assoc t (d_schema w) with
-                       | Some cols => ans_eqb a (ARows cols (rows_of t (d_data w)))
-                       | None => is_error a
-                       end
-           | None => is_error a
-           end
-         | _ => match a with ARows _ _ | AHist _ _ => want_commit r v t a | _ => true end   (* refusing is fine; rows must be the right ones *)
-         end
-:    if revdb_denotes r v then want_commit r v t a
-    else match (norm_base r (fst v), snd v) with
-         | (BBranch b, []) =>                         (* dirty branch: `db/branch` is the branch's working set *)
-           match branch_working r b with
-           | Some w => match assoc t (d_schema w) with
-                       | Some cols => ans_eqb a (ARows cols (rows_of t (d_data w)))
-                       | None => is_error a
-                       end
-           | None => is_error a
-           end
-         | _ => match a with ARows _ _ | AHist _ _ => want_commit r v t a | _ => true end   (* refusing is fine; rows must be the right ones *)
-         end
-     if revdb_denotes r v then want_commit r v t a
-    else match (norm_base r (fst v), snd v) with
-         | (BBranch b, []) =>                         (* dirty branch: `db/branch` is the branch's working set *)
-           match branch_working r b with
-           | Some w => match assoc t (d_schema w) with
-                       | Some cols => ans_eqb a (ARows cols (rows_of t (d_data w)))
-                       | None => is_error a
-                       end
-           | None => is_error a
-           end
-         | _ => match a with ARows _ _ | AHist _ _ => want_commit r v t a | _ => true end   (* refusing is fine; rows must be the right ones *)
-         end
-l    if revdb_denotes r v then want_commit r v t a
-    else match (norm_base r (fst v), snd v) with
-         | (BBranch b, []) =>                         (* dirty branch: `db/branch` is the branch's working set *)
-           match branch_working r b with
-           | Some w => match assoc t (d_schema w) with
-                       | Some cols => ans_eqb a (ARows cols (rows_of t (d_data w)))
-                       | None => is_error a
-                       end
-           | None => is_error a
-           end
-         | _ => match a with ARows _ _ | AHist _ _ => want_commit r v t a | _ => true end   (* refusing is fine; rows must be the right ones *)
-         end
-i    if revdb_denotes r v then want_commit r v t a
-    else match (norm_base r (fst v), snd v) with
-         | (BBranch b, []) =>                         (* dirty branch: `db/branch` is the branch's working set *)
-           match branch_working r b with
-           | Some w => match assoc t (d_schema w) with
-                       | Some cols => ans_eqb a (ARows cols (rows_of t (d_data w)))
-                       | None => is_error a
-                       end
-           | None => is_error a
-           end
-         | _ => match a with ARows _ _ | AHist _ _ => want_commit r v t a | _ => true end   (* refusing is fine; rows must be the right ones *)
-         end
-s    if revdb_denotes r v then want_commit r v t a
-    else match (norm_base r (fst v), snd v) with
-         | (BBranch b, []) =>                         (* dirty branch: `db/branch` is the branch's working set *)
-           match branch_working r b with
-           | Some w => match assoc t (d_schema w) with
-                       | Some cols => ans_eqb a (ARows cols (rows_of t (d_data w)))
-                       | None => is_error a
-                       end
-           | None => is_error a
-           end
-         | _ => match a with ARows _ _ | AHist _ _ => want_commit r v t a | _ => true end   (* refusing is fine; rows must be the right ones *)
-         end
-t    if revdb_denotes r v then want_commit r v t a
-    else match (norm_base r (fst v), snd v) with
-         | (BBranch b, []) =>                         (* dirty branch: `db/branch` is the branch's working set *)
-           match branch_working r b with
-           | Some w => match assoc t (d_schema w) with
-                       | Some cols => ans_eqb a (ARows cols (rows_of t (d_data w)))
-                       | None => is_error a
-                       end
-           | None => is_error a
-           end
-         | _ => match a with ARows _ _ | AHist _ _ => want_commit r v t a | _ => true end   (* refusing is fine; rows must be the right ones *)
-         end
-     if revdb_denotes r v then want_commit r v t a
-    else match (norm_base r (fst v), snd v) with
-         | (BBranch b, []) =>                         (* dirty branch: `db/branch` is the branch's working set *)
-           match branch_working r b with
-           | Some w => match assoc t (d_schema w) with
-                       | Some cols => ans_eqb a (ARows cols (rows_of t (d_data w)))
-                       | None => is_error a
-                       end
-           | None => is_error a
-           end
-         | _ => match a with ARows _ _ | AHist _ _ => want_commit r v t a | _ => true end   (* refusing is fine; rows must be the right ones *)
-         end
-q    if revdb_denotes r v then want_commit r v t a
-    else match (norm_base r (fst v), snd v) with
-         | (BBranch b, []) =>                         (* dirty branch: `db/branch` is the branch's working set *)
-           match branch_working r b with
-           | Some w => match assoc t (d_schema w) with
-                       | Some cols => ans_eqb a (ARows cols (rows_of t (d_data w)))
-                       | None => is_error a
-                       end
-           | None => is_error a
-           end
-         | _ => match a with ARows _ _ | AHist _ _ => want_commit r v t a | _ => true end   (* refusing is fine; rows must be the right ones *)
-         end
-u    if revdb_denotes r v then want_commit r v t a
-    else match (norm_base r (fst v), snd v) with
-         | (BBranch b, []) =>                         (* dirty branch: `db/branch` is the branch's working set *)
-           match branch_working r b with
-           | Some w => match assoc t (d_schema w) with
-                       | Some cols => ans_eqb a (ARows cols (rows_of t (d_data w)))
-                       | None => is_error a
-                       end
-           | None => is_error a
-           end
-         | _ => match a with ARows _ _ | AHist _ _ => want_commit r v t a | _ => true end   (* refusing is fine; rows must be the right ones *)
-         end
-e    if revdb_denotes r v then want_commit r v t a
-    else match (norm_base r (fst v), snd v) with
-         | (BBranch b, []) =>                         (* dirty branch: `db/branch` is the branch's working set *)
-           match branch_working r b with
-           | Some w => match assoc t (d_schema w) with
-                       | Some cols => ans_eqb a (ARows cols (rows_of t (d_data w)))
-                       | None => is_error a
-                       end
-           | None => is_error a
-           end
-         | _ => match a with ARows _ _ | AHist _ _ => want_commit r v t a | _ => true end   (* refusing is fine; rows must be the right ones *)
-         end
-r    if revdb_denotes r v then want_commit r v t a
-    else match (norm_base r (fst v), snd v) with
-         | (BBranch b, []) =>                         (* dirty branch: `db/branch` is the branch's working set *)
-           match branch_working r b with
-           | Some w => match assoc t (d_schema w) with
-                       | Some cols => ans_eqb a (ARows cols (rows_of t (d_data w)))
-                       | None => is_error a
-                       end
-           | None => is_error a
-           end
-         | _ => match a with ARows _ _ | AHist _ _ => want_commit r v t a | _ => true end   (* refusing is fine; rows must be the right ones *)
-         end
-y    if revdb_denotes r v then want_commit r v t a
-    else match (norm_base r (fst v), snd v) with
-         | (BBranch b, []) =>                         (* dirty branch: `db/branch` is the branch's working set *)
-           match branch_working r b with
-           | Some w => match assoc t (d_schema w) with
-                       | Some cols => ans_eqb a (ARows cols (rows_of t (d_data w)))
-                       | None => is_error a
-                       end
-           | None => is_error a
-           end
-         | _ => match a with ARows _ _ | AHist _ _ => want_commit r v t a | _ => true end   (* refusing is fine; rows must be the right ones *)
-         end
-)    if revdb_denotes r v then want_commit r v t a
-    else match (norm_base r (fst v), snd v) with
-         | (BBranch b, []) =>                         (* dirty branch: `db/branch` is the branch's working set *)
-           match branch_working r b with
-           | Some w => match assoc t (d_schema w) with
-                       | Some cols => ans_eqb a (ARows cols (rows_of t (d_data w)))
-                       | None => is_error a
-                       end
-           | None => is_error a
-           end
-         | _ => match a with ARows _ _ | AHist _ _ => want_commit r v t a | _ => true end   (* refusing is fine; rows must be the right ones *)
-         end
-     if revdb_denotes r v then want_commit r v t a
-    else match (norm_base r (fst v), snd v) with
-         | (BBranch b, []) =>                         (* dirty branch: `db/branch` is the branch's working set *)
-           match branch_working r b with
-           | Some w => match assoc t (d_schema w) with
-                       | Some cols => ans_eqb a (ARows cols (rows_of t (d_data w)))
-                       | None => is_error a
-                       end
-           | None => is_error a
-           end
-         | _ => match a with ARows _ _ | AHist _ _ => want_commit r v t a | _ => true end   (* refusing is fine; rows must be the right ones *)
-         end
-(    if revdb_denotes r v then want_commit r v t a
-    else match (norm_base r (fst v), snd v) with
-         | (BBranch b, []) =>                         (* dirty branch: `db/branch` is the branch's working set *)
-           match branch_working r b with
-           | Some w => match assoc t (d_schema w) with
-                       | Some cols => ans_eqb a (ARows cols (rows_of t (d_data w)))
-                       | None => is_error a
-                       end
-           | None => is_error a
-           end
-         | _ => match a with ARows _ _ | AHist _ _ => want_commit r v t a | _ => true end   (* refusing is fine; rows must be the right ones *)
-         end
-o    if revdb_denotes r v then want_commit r v t a
-    else match (norm_base r (fst v), snd v) with
-         | (BBranch b, []) =>                         (* dirty branch: `db/branch` is the branch's working set *)
-           match branch_working r b with
-           | Some w => match assoc t (d_schema w) with
-                       | Some cols => ans_eqb a (ARows cols (rows_of t (d_data w)))
-                       | None => is_error a
-                       end
-           | None => is_error a
-           end
-         | _ => match a with ARows _ _ | AHist _ _ => want_commit r v t a | _ => true end   (* refusing is fine; rows must be the right ones *)
-         end
-     if revdb_denotes r v then want_commit r v t a
-    else match (norm_base r (fst v), snd v) with
-         | (BBranch b, []) =>                         (* dirty branch: `db/branch` is the branch's working set *)
-           match branch_working r b with
-           | Some w => match assoc t (d_schema w) with
-                       | Some cols => ans_eqb a (ARows cols (rows_of t (d_data w)))
-                       | None => is_error a
-                       end
-           | None => is_error a
-           end
-         | _ => match a with ARows _ _ | AHist _ _ => want_commit r v t a | _ => true end   (* refusing is fine; rows must be the right ones *)
-         end
-:    if revdb_denotes r v then want_commit r v t a
-    else match (norm_base r (fst v), snd v) with
-         | (BBranch b, []) =>                         (* dirty branch: `db/branch` is the branch's working set *)
-           match branch_working r b with
-           | Some w => match assoc t (d_schema w) with
-                       | Some cols => ans_eqb a (ARows cols (rows_of t (d_data w)))
-                       | None => is_error a
-                       end
-           | None => is_error a
-           end
-         | _ => match a with ARows _ _ | AHist _ _ => want_commit r v t a | _ => true end   (* refusing is fine; rows must be the right ones *)
-         end
-     if revdb_denotes r v then want_commit r v t a
-    else match (norm_base r (fst v), snd v) with
-         | (BBranch b, []) =>                         (* dirty branch: `db/branch` is the branch's working set *)
-           match branch_working r b with
-           | Some w => match assoc t (d_schema w) with
-                       | Some cols => ans_eqb a (ARows cols (rows_of t (d_data w)))
-                       | None => is_error a
-                       end
-           | None => is_error a
-           end
-         | _ => match a with ARows _ _ | AHist _ _ => want_commit r v t a | _ => true end   (* refusing is fine; rows must be the right ones *)
-         end
-o    if revdb_denotes r v then want_commit r v t a
-    else match (norm_base r (fst v), snd v) with
-         | (BBranch b, []) =>                         (* dirty branch: `db/branch` is the branch's working set *)
-           match branch_working r b with
-           | Some w => match assoc t (d_schema w) with
-                       | Some cols => ans_eqb a (ARows cols (rows_of t (d_data w)))
-                       | None => is_error a
-                       end
-           | None => is_error a
-           end
-         | _ => match a with ARows _ _ | AHist _ _ => want_commit r v t a | _ => true end   (* refusing is fine; rows must be the right ones *)
-         end
-b    if revdb_denotes r v then want_commit r v t a
-    else match (norm_base r (fst v), snd v) with
-         | (BBranch b, []) =>                         (* dirty branch: `db/branch` is the branch's working set *)
-           match branch_working r b with
-           | Some w => match assoc t (d_schema w) with
-                       | Some cols => ans_eqb a (ARows cols (rows_of t (d_data w)))
-                       | None => is_error a
-                       end
-           | None => is_error a
-           end
-         | _ => match a with ARows _ _ | AHist _ _ => want_commit r v t a | _ => true end   (* refusing is fine; rows must be the right ones *)
-         end
-s    if revdb_denotes r v then want_commit r v t a
-    else match (norm_base r (fst v), snd v) with
-         | (BBranch b, []) =>                         (* dirty branch: `db/branch` is the branch's working set *)
-           match branch_working r b with
-           | Some w => match assoc t (d_schema w) with
-                       | Some cols => ans_eqb a (ARows cols (rows_of t (d_data w)))
-                       | None => is_error a
-                       end
-           | None => is_error a
-           end
-         | _ => match a with ARows _ _ | AHist _ _ => want_commit r v t a | _ => true end   (* refusing is fine; rows must be the right ones *)
-         end
-)    if revdb_denotes r v then want_commit r v t a
-    else match (norm_base r (fst v), snd v) with
-         | (BBranch b, []) =>                         (* dirty branch: `db/branch` is the branch's working set *)
-           match branch_working r b with
-           | Some w => match assoc t (d_schema w) with
-                       | Some cols => ans_eqb a (ARows cols (rows_of t (d_data w)))
-                       | None => is_error a
-                       end
-           | None => is_error a
-           end
-         | _ => match a with ARows _ _ | AHist _ _ => want_commit r v t a | _ => true end   (* refusing is fine; rows must be the right ones *)
-         end
-     if revdb_denotes r v then want_commit r v t a
-    else match (norm_base r (fst v), snd v) with
-         | (BBranch b, []) =>                         (* dirty branch: `db/branch` is the branch's working set *)
-           match branch_working r b with
-           | Some w => match assoc t (d_schema w) with
-                       | Some cols => ans_eqb a (ARows cols (rows_of t (d_data w)))
-                       | None => is_error a
-                       end
-           | None => is_error a
-           end
-         | _ => match a with ARows _ _ | AHist _ _ => want_commit r v t a | _ => true end   (* refusing is fine; rows must be the right ones *)
-         end
-:    if revdb_denotes r v then want_commit r v t a
-    else match (norm_base r (fst v), snd v) with
-         | (BBranch b, []) =>                         (* dirty branch: `db/branch` is the branch's working set *)
-           match branch_working r b with
-           | Some w => match assoc t (d_schema w) with
-                       | Some cols => ans_eqb a (ARows cols (rows_of t (d_data w)))
-                       | None => is_error a
-                       end
-           | None => is_error a
-           end
-         | _ => match a with ARows _ _ | AHist _ _ => want_commit r v t a | _ => true end   (* refusing is fine; rows must be the right ones *)
-         end
-     if revdb_denotes r v then want_commit r v t a
-    else match (norm_base r (fst v), snd v) with
-         | (BBranch b, []) =>                         (* dirty branch: `db/branch` is the branch's working set *)
-           match branch_working r b with
-           | Some w => match assoc t (d_schema w) with
-                       | Some cols => ans_eqb a (ARows cols (rows_of t (d_data w)))
-                       | None => is_error a
-                       end
-           | None => is_error a
-           end
-         | _ => match a with ARows _ _ | AHist _ _ => want_commit r v t a | _ => true end   (* refusing is fine; rows must be the right ones *)
-         end
-b    if revdb_denotes r v then want_commit r v t a
-    else match (norm_base r (fst v), snd v) with
-         | (BBranch b, []) =>                         (* dirty branch: `db/branch` is the branch's working set *)
-           match branch_working r b with
-           | Some w => match assoc t (d_schema w) with
-                       | Some cols => ans_eqb a (ARows cols (rows_of t (d_data w)))
-                       | None => is_error a
-                       end
-           | None => is_error a
-           end
-         | _ => match a with ARows _ _ | AHist _ _ => want_commit r v t a | _ => true end   (* refusing is fine; rows must be the right ones *)
-         end
-o    if revdb_denotes r v then want_commit r v t a
-    else match (norm_base r (fst v), snd v) with
-         | (BBranch b, []) =>                         (* dirty branch: `db/branch` is the branch's working set *)
-           match branch_working r b with
-           | Some w => match assoc t (d_schema w) with
-                       | Some cols => ans_eqb a (ARows cols (rows_of t (d_data w)))
-                       | None => is_error a
-                       end
-           | None => is_error a
-           end
-         | _ => match a with ARows _ _ | AHist _ _ => want_commit r v t a | _ => true end   (* refusing is fine; rows must be the right ones *)
-         end
-o    if revdb_denotes r v then want_commit r v t a
-    else match (norm_base r (fst v), snd v) with
-         | (BBranch b, []) =>                         (* dirty branch: `db/branch` is the branch's working set *)
-           match branch_working r b with
-           | Some w => match assoc t (d_schema w) with
-                       | Some cols => ans_eqb a (ARows cols (rows_of t (d_data w)))
-                       | None => is_error a
-                       end
-           | None => is_error a
-           end
-         | _ => match a with ARows _ _ | AHist _ _ => want_commit r v t a | _ => true end   (* refusing is fine; rows must be the right ones *)
-         end
-l    if revdb_denotes r v then want_commit r v t a
-    else match (norm_base r (fst v), snd v) with
-         | (BBranch b, []) =>                         (* dirty branch: `db/branch` is the branch's working set *)
-           match branch_working r b with
-           | Some w => match assoc t (d_schema w) with
-                       | Some cols => ans_eqb a (ARows cols (rows_of t (d_data w)))
-                       | None => is_error a
-                       end
-           | None => is_error a
-           end
-         | _ => match a with ARows _ _ | AHist _ _ => want_commit r v t a | _ => true end   (* refusing is fine; rows must be the right ones *)
-         end
-     if revdb_denotes r v then want_commit r v t a
-    else match (norm_base r (fst v), snd v) with
-         | (BBranch b, []) =>                         (* dirty branch: `db/branch` is the branch's working set *)
-           match branch_working r b with
-           | Some w => match assoc t (d_schema w) with
-                       | Some cols => ans_eqb a (ARows cols (rows_of t (d_data w)))
-                       | None => is_error a
-                       end
-           | None => is_error a
-           end
-         | _ => match a with ARows _ _ | AHist _ _ => want_commit r v t a | _ => true end   (* refusing is fine; rows must be the right ones *)
-         end
-:    if revdb_denotes r v then want_commit r v t a
-    else match (norm_base r (fst v), snd v) with
-         | (BBranch b, []) =>                         (* dirty branch: `db/branch` is the branch's working set *)
-           match branch_working r b with
-           | Some w => match assoc t (d_schema w) with
-                       | Some cols => ans_eqb a (ARows cols (rows_of t (d_data w)))
-                       | None => is_error a
-                       end
-           | None => is_error a
-           end
-         | _ => match a with ARows _ _ | AHist _ _ => want_commit r v t a | _ => true end   (* refusing is fine; rows must be the right ones *)
-         end
-=    if revdb_denotes r v then want_commit r v t a
-    else match (norm_base r (fst v), snd v) with
-         | (BBranch b, []) =>                         (* dirty branch: `db/branch` is the branch's working set *)
-           match branch_working r b with
-           | Some w => match assoc t (d_schema w) with
-                       | Some cols => ans_eqb a (ARows cols (rows_of t (d_data w)))
-                       | None => is_error a
-                       end
-           | None => is_error a
-           end
-         | _ => match a with ARows _ _ | AHist _ _ => want_commit r v t a | _ => true end   (* refusing is fine; rows must be the right ones *)
-         end
-
-    if revdb_denotes r v then want_commit r v t a
-    else match (norm_base r (fst v), snd v) with
-         | (BBranch b, []) =>                         (* dirty branch: `db/branch` is the branch's working set *)
-           match branch_working r b with
-           | Some w => match assoc t (d_schema w) with
-                       | Some cols => ans_eqb a (ARows cols (rows_of t (d_data w)))
-                       | None => is_error a
-                       end
-           | None => is_error a
-           end
-         | _ => match a with ARows _ _ | AHist _ _ => want_commit r v t a | _ => true end   (* refusing is fine; rows must be the right ones *)
-         end
-     if revdb_denotes r v then want_commit r v t a
-    else match (norm_base r (fst v), snd v) with
-         | (BBranch b, []) =>                         (* dirty branch: `db/branch` is the branch's working set *)
-           match branch_working r b with
-           | Some w => match assoc t (d_schema w) with
-                       | Some cols => ans_eqb a (ARows cols (rows_of t (d_data w)))
-                       | None => is_error a
-                       end
-           | None => is_error a
-           end
-         | _ => match a with ARows _ _ | AHist _ _ => want_commit r v t a | _ => true end   (* refusing is fine; rows must be the right ones *)
-         end
-     if revdb_denotes r v then want_commit r v t a
-    else match (norm_base r (fst v), snd v) with
-         | (BBranch b, []) =>                         (* dirty branch: `db/branch` is the branch's working set *)
-           match branch_working r b with
-           | Some w => match assoc t (d_schema w) with
-                       | Some cols => ans_eqb a (ARows cols (rows_of t (d_data w)))
-                       | None => is_error a
-                       end
-           | None => is_error a
-           end
-         | _ => match a with ARows _ _ | AHist _ _ => want_commit r v t a | _ => true end   (* refusing is fine; rows must be the right ones *)
-         end
-m    if revdb_denotes r v then want_commit r v t a
-    else match (norm_base r (fst v), snd v) with
-         | (BBranch b, []) =>                         (* dirty branch: `db/branch` is the branch's working set *)
-           match branch_working r b with
-           | Some w => match assoc t (d_schema w) with
-                       | Some cols => ans_eqb a (ARows cols (rows_of t (d_data w)))
-                       | None => is_error a
-                       end
-           | None => is_error a
-           end
-         | _ => match a with ARows _ _ | AHist _ _ => want_commit r v t a | _ => true end   (* refusing is fine; rows must be the right ones *)
-         end
-a    if revdb_denotes r v then want_commit r v t a
-    else match (norm_base r (fst v), snd v) with
-         | (BBranch b, []) =>                         (* dirty branch: `db/branch` is the branch's working set *)
-           match branch_working r b with
-           | Some w => match assoc t (d_schema w) with
-                       | Some cols => ans_eqb a (ARows cols (rows_of t (d_data w)))
-                       | None => is_error a
-                       end
-           | None => is_error a
-           end
-         | _ => match a with ARows _ _ | AHist _ _ => want_commit r v t a | _ => true end   (* refusing is fine; rows must be the right ones *)
-         end
-t    if revdb_denotes r v then want_commit r v t a
-    else match (norm_base r (fst v), snd v) with
-         | (BBranch b, []) =>                         (* dirty branch: `db/branch` is the branch's working set *)
-           match branch_working r b with
-           | Some w => match assoc t (d_schema w) with
-                       | Some cols => ans_eqb a (ARows cols (rows_of t (d_data w)))
-                       | None => is_error a
-                       end
-           | None => is_error a
-           end
-         | _ => match a with ARows _ _ | AHist _ _ => want_commit r v t a | _ => true end   (* refusing is fine; rows must be the right ones *)
-         end
-c    if revdb_denotes r v then want_commit r v t a
-    else match (norm_base r (fst v), snd v) with
-         | (BBranch b, []) =>                         (* dirty branch: `db/branch` is the branch's working set *)
-           match branch_working r b with
-           | Some w => match assoc t (d_schema w) with
-                       | Some cols => ans_eqb a (ARows cols (rows_of t (d_data w)))
-                       | None => is_error a
-                       end
-           | None => is_error a
-           end
-         | _ => match a with ARows _ _ | AHist _ _ => want_commit r v t a | _ => true end   (* refusing is fine; rows must be the right ones *)
-         end
-h    if revdb_denotes r v then want_commit r v t a
-    else match (norm_base r (fst v), snd v) with
-         | (BBranch b, []) =>                         (* dirty branch: `db/branch` is the branch's working set *)
-           match branch_working r b with
-           | Some w => match assoc t (d_schema w) with
-                       | Some cols => ans_eqb a (ARows cols (rows_of t (d_data w)))
-                       | None => is_error a
-                       end
-           | None => is_error a
-           end
-         | _ => match a with ARows _ _ | AHist _ _ => want_commit r v t a | _ => true end   (* refusing is fine; rows must be the right ones *)
-         end
-     if revdb_denotes r v then want_commit r v t a
-    else match (norm_base r (fst v), snd v) with
-         | (BBranch b, []) =>                         (* dirty branch: `db/branch` is the branch's working set *)
-           match branch_working r b with
-           | Some w => match assoc t (d_schema w) with
-                       | Some cols => ans_eqb a (ARows cols (rows_of t (d_data w)))
-                       | None => is_error a
-                       end
-           | None => is_error a
-           end
-         | _ => match a with ARows _ _ | AHist _ _ => want_commit r v t a | _ => true end   (* refusing is fine; rows must be the right ones *)
-         end
-q    if revdb_denotes r v then want_commit r v t a
-    else match (norm_base r (fst v), snd v) with
-         | (BBranch b, []) =>                         (* dirty branch: `db/branch` is the branch's working set *)
-           match branch_working r b with
-           | Some w => match assoc t (d_schema w) with
-                       | Some cols => ans_eqb a (ARows cols (rows_of t (d_data w)))
-                       | None => is_error a
-                       end
-           | None => is_error a
-           end
-         | _ => match a with ARows _ _ | AHist _ _ => want_commit r v t a | _ => true end   (* refusing is fine; rows must be the right ones *)
-         end
-s    if revdb_denotes r v then want_commit r v t a
-    else match (norm_base r (fst v), snd v) with
-         | (BBranch b, []) =>                         (* dirty branch: `db/branch` is the branch's working set *)
-           match branch_working r b with
-           | Some w => match assoc t (d_schema w) with
-                       | Some cols => ans_eqb a (ARows cols (rows_of t (d_data w)))
-                       | None => is_error a
-                       end
-           | None => is_error a
-           end
-         | _ => match a with ARows _ _ | AHist _ _ => want_commit r v t a | _ => true end   (* refusing is fine; rows must be the right ones *)
-         end
-,    if revdb_denotes r v then want_commit r v t a
-    else match (norm_base r (fst v), snd v) with
-         | (BBranch b, []) =>                         (* dirty branch: `db/branch` is the branch's working set *)
-           match branch_working r b with
-           | Some w => match assoc t (d_schema w) with
-                       | Some cols => ans_eqb a (ARows cols (rows_of t (d_data w)))
-                       | None => is_error a
-                       end
-           | None => is_error a
-           end
-         | _ => match a with ARows _ _ | AHist _ _ => want_commit r v t a | _ => true end   (* refusing is fine; rows must be the right ones *)
-         end
-     if revdb_denotes r v then want_commit r v t a
-    else match (norm_base r (fst v), snd v) with
-         | (BBranch b, []) =>                         (* dirty branch: `db/branch` is the branch's working set *)
-           match branch_working r b with
-           | Some w => match assoc t (d_schema w) with
-                       | Some cols => ans_eqb a (ARows cols (rows_of t (d_data w)))
-                       | None => is_error a
-                       end
-           | None => is_error a
-           end
-         | _ => match a with ARows _ _ | AHist _ _ => want_commit r v t a | _ => true end   (* refusing is fine; rows must be the right ones *)
-         end
-o    if revdb_denotes r v then want_commit r v t a
-    else match (norm_base r (fst v), snd v) with
-         | (BBranch b, []) =>                         (* dirty branch: `db/branch` is the branch's working set *)
-           match branch_working r b with
-           | Some w => match assoc t (d_schema w) with
-                       | Some cols => ans_eqb a (ARows cols (rows_of t (d_data w)))
-                       | None => is_error a
-                       end
-           | None => is_error a
-           end
-         | _ => match a with ARows _ _ | AHist _ _ => want_commit r v t a | _ => true end   (* refusing is fine; rows must be the right ones *)
-         end
-     if revdb_denotes r v then want_commit r v t a
-    else match (norm_base r (fst v), snd v) with
-         | (BBranch b, []) =>                         (* dirty branch: `db/branch` is the branch's working set *)
-           match branch_working r b with
-           | Some w => match assoc t (d_schema w) with
-                       | Some cols => ans_eqb a (ARows cols (rows_of t (d_data w)))
-                       | None => is_error a
-                       end
-           | None => is_error a
-           end
-         | _ => match a with ARows _ _ | AHist _ _ => want_commit r v t a | _ => true end   (* refusing is fine; rows must be the right ones *)
-         end
-w    if revdb_denotes r v then want_commit r v t a
-    else match (norm_base r (fst v), snd v) with
-         | (BBranch b, []) =>                         (* dirty branch: `db/branch` is the branch's working set *)
-           match branch_working r b with
-           | Some w => match assoc t (d_schema w) with
-                       | Some cols => ans_eqb a (ARows cols (rows_of t (d_data w)))
-                       | None => is_error a
-                       end
-           | None => is_error a
-           end
-         | _ => match a with ARows _ _ | AHist _ _ => want_commit r v t a | _ => true end   (* refusing is fine; rows must be the right ones *)
-         end
-i    if revdb_denotes r v then want_commit r v t a
-    else match (norm_base r (fst v), snd v) with
-         | (BBranch b, []) =>                         (* dirty branch: `db/branch` is the branch's working set *)
-           match branch_working r b with
-           | Some w => match assoc t (d_schema w) with
-                       | Some cols => ans_eqb a (ARows cols (rows_of t (d_data w)))
-                       | None => is_error a
-                       end
-           | None => is_error a
-           end
-         | _ => match a with ARows _ _ | AHist _ _ => want_commit r v t a | _ => true end   (* refusing is fine; rows must be the right ones *)
-         end
-t    if revdb_denotes r v then want_commit r v t a
-    else match (norm_base r (fst v), snd v) with
-         | (BBranch b, []) =>                         (* dirty branch: `db/branch` is the branch's working set *)
-           match branch_working r b with
-           | Some w => match assoc t (d_schema w) with
-                       | Some cols => ans_eqb a (ARows cols (rows_of t (d_data w)))
-                       | None => is_error a
-                       end
-           | None => is_error a
-           end
-         | _ => match a with ARows _ _ | AHist _ _ => want_commit r v t a | _ => true end   (* refusing is fine; rows must be the right ones *)
-         end
-h    if revdb_denotes r v then want_commit r v t a
-    else match (norm_base r (fst v), snd v) with
-         | (BBranch b, []) =>                         (* dirty branch: `db/branch` is the branch's working set *)
-           match branch_working r b with
-           | Some w => match assoc t (d_schema w) with
-                       | Some cols => ans_eqb a (ARows cols (rows_of t (d_data w)))
-                       | None => is_error a
-                       end
-           | None => is_error a
-           end
-         | _ => match a with ARows _ _ | AHist _ _ => want_commit r v t a | _ => true end   (* refusing is fine; rows must be the right ones *)
-         end
-
-    if revdb_denotes r v then want_commit r v t a
-    else match (norm_base r (fst v), snd v) with
-         | (BBranch b, []) =>                         (* dirty branch: `db/branch` is the branch's working set *)
-           match branch_working r b with
-           | Some w => match assoc t (d_schema w) with
-                       | Some cols => ans_eqb a (ARows cols (rows_of t (d_data w)))
-                       | None => is_error a
-                       end
-           | None => is_error a
-           end
-         | _ => match a with ARows _ _ | AHist _ _ => want_commit r v t a | _ => true end   (* refusing is fine; rows must be the right ones *)
-         end
-     if revdb_denotes r v then want_commit r v t a
-    else match (norm_base r (fst v), snd v) with
-         | (BBranch b, []) =>                         (* dirty branch: `db/branch` is the branch's working set *)
-           match branch_working r b with
-           | Some w => match assoc t (d_schema w) with
-                       | Some cols => ans_eqb a (ARows cols (rows_of t (d_data w)))
-                       | None => is_error a
-                       end
-           | None => is_error a
-           end
-         | _ => match a with ARows _ _ | AHist _ _ => want_commit r v t a | _ => true end   (* refusing is fine; rows must be the right ones *)
-         end
-     if revdb_denotes r v then want_commit r v t a
-    else match (norm_base r (fst v), snd v) with
-         | (BBranch b, []) =>                         (* dirty branch: `db/branch` is the branch's working set *)
-           match branch_working r b with
-           | Some w => match assoc t (d_schema w) with
-                       | Some cols => ans_eqb a (ARows cols (rows_of t (d_data w)))
-                       | None => is_error a
-                       end
-           | None => is_error a
-           end
-         | _ => match a with ARows _ _ | AHist _ _ => want_commit r v t a | _ => true end   (* refusing is fine; rows must be the right ones *)
-         end
-|    if revdb_denotes r v then want_commit r v t a
-    else match (norm_base r (fst v), snd v) with
-         | (BBranch b, []) =>                         (* dirty branch: `db/branch` is the branch's working set *)
-           match branch_working r b with
-           | Some w => match assoc t (d_schema w) with
-                       | Some cols => ans_eqb a (ARows cols (rows_of t (d_data w)))
-                       | None => is_error a
-                       end
-           | None => is_error a
-           end
-         | _ => match a with ARows _ _ | AHist _ _ => want_commit r v t a | _ => true end   (* refusing is fine; rows must be the right ones *)
-         end
-     if revdb_denotes r v then want_commit r v t a
-    else match (norm_base r (fst v), snd v) with
-         | (BBranch b, []) =>                         (* dirty branch: `db/branch` is the branch's working set *)
-           match branch_working r b with
-           | Some w => match assoc t (d_schema w) with
-                       | Some cols => ans_eqb a (ARows cols (rows_of t (d_data w)))
-                       | None => is_error a
-                       end
-           | None => is_error a
-           end
-         | _ => match a with ARows _ _ | AHist _ _ => want_commit r v t a | _ => true end   (* refusing is fine; rows must be the right ones *)
-         end
-[    if revdb_denotes r v then want_commit r v t a
-    else match (norm_base r (fst v), snd v) with
-         | (BBranch b, []) =>                         (* dirty branch: `db/branch` is the branch's working set *)
-           match branch_working r b with
-           | Some w => match assoc t (d_schema w) with
-                       | Some cols => ans_eqb a (ARows cols (rows_of t (d_data w)))
-                       | None => is_error a
-                       end
-           | None => is_error a
-           end
-         | _ => match a with ARows _ _ | AHist _ _ => want_commit r v t a | _ => true end   (* refusing is fine; rows must be the right ones *)
-         end
-]    if revdb_denotes r v then want_commit r v t a
-    else match (norm_base r (fst v), snd v) with
-         | (BBranch b, []) =>                         (* dirty branch: `db/branch` is the branch's working set *)
-           match branch_working r b with
-           | Some w => match assoc t (d_schema w) with
-                       | Some cols => ans_eqb a (ARows cols (rows_of t (d_data w)))
-                       | None => is_error a
-                       end
-           | None => is_error a
-           end
-         | _ => match a with ARows _ _ | AHist _ _ => want_commit r v t a | _ => true end   (* refusing is fine; rows must be the right ones *)
-         end
-,    if revdb_denotes r v then want_commit r v t a
-    else match (norm_base r (fst v), snd v) with
-         | (BBranch b, []) =>                         (* dirty branch: `db/branch` is the branch's working set *)
-           match branch_working r b with
-           | Some w => match assoc t (d_schema w) with
-                       | Some cols => ans_eqb a (ARows cols (rows_of t (d_data w)))
-                       | None => is_error a
-                       end
-           | None => is_error a
-           end
-         | _ => match a with ARows _ _ | AHist _ _ => want_commit r v t a | _ => true end   (* refusing is fine; rows must be the right ones *)
-         end
-     if revdb_denotes r v then want_commit r v t a
-    else match (norm_base r (fst v), snd v) with
-         | (BBranch b, []) =>                         (* dirty branch: `db/branch` is the branch's working set *)
-           match branch_working r b with
-           | Some w => match assoc t (d_schema w) with
-                       | Some cols => ans_eqb a (ARows cols (rows_of t (d_data w)))
-                       | None => is_error a
-                       end
-           | None => is_error a
-           end
-         | _ => match a with ARows _ _ | AHist _ _ => want_commit r v t a | _ => true end   (* refusing is fine; rows must be the right ones *)
-         end
-[    if revdb_denotes r v then want_commit r v t a
-    else match (norm_base r (fst v), snd v) with
-         | (BBranch b, []) =>                         (* dirty branch: `db/branch` is the branch's working set *)
-           match branch_working r b with
-           | Some w => match assoc t (d_schema w) with
-                       | Some cols => ans_eqb a (ARows cols (rows_of t (d_data w)))
-                       | None => is_error a
-                       end
-           | None => is_error a
-           end
-         | _ => match a with ARows _ _ | AHist _ _ => want_commit r v t a | _ => true end   (* refusing is fine; rows must be the right ones *)
-         end
-]    if revdb_denotes r v then want_commit r v t a
-    else match (norm_base r (fst v), snd v) with
-         | (BBranch b, []) =>                         (* dirty branch: `db/branch` is the branch's working set *)
-           match branch_working r b with
-           | Some w => match assoc t (d_schema w) with
-                       | Some cols => ans_eqb a (ARows cols (rows_of t (d_data w)))
-                       | None => is_error a
-                       end
-           | None => is_error a
-           end
-         | _ => match a with ARows _ _ | AHist _ _ => want_commit r v t a | _ => true end   (* refusing is fine; rows must be the right ones *)
-         end
-     if revdb_denotes r v then want_commit r v t a
-    else match (norm_base r (fst v), snd v) with
-         | (BBranch b, []) =>                         (* dirty branch: `db/branch` is the branch's working set *)
-           match branch_working r b with
-           | Some w => match assoc t (d_schema w) with
-                       | Some cols => ans_eqb a (ARows cols (rows_of t (d_data w)))
-                       | None => is_error a
-                       end
-           | None => is_error a
-           end
-         | _ => match a with ARows _ _ | AHist _ _ => want_commit r v t a | _ => true end   (* refusing is fine; rows must be the right ones *)
-         end
-=    if revdb_denotes r v then want_commit r v t a
-    else match (norm_base r (fst v), snd v) with
-         | (BBranch b, []) =>                         (* dirty branch: `db/branch` is the branch's working set *)
-           match branch_working r b with
-           | Some w => match assoc t (d_schema w) with
-                       | Some cols => ans_eqb a (ARows cols (rows_of t (d_data w)))
-                       | None => is_error a
-                       end
-           | None => is_error a
-           end
-         | _ => match a with ARows _ _ | AHist _ _ => want_commit r v t a | _ => true end   (* refusing is fine; rows must be the right ones *)
-         end
->    if revdb_denotes r v then want_commit r v t a
-    else match (norm_base r (fst v), snd v) with
-         | (BBranch b, []) =>                         (* dirty branch: `db/branch` is the branch's working set *)
-           match branch_working r b with
-           | Some w => match assoc t (d_schema w) with
-                       | Some cols => ans_eqb a (ARows cols (rows_of t (d_data w)))
-                       | None => is_error a
-                       end
-           | None => is_error a
-           end
-         | _ => match a with ARows _ _ | AHist _ _ => want_commit r v t a | _ => true end   (* refusing is fine; rows must be the right ones *)
-         end
-     if revdb_denotes r v then want_commit r v t a
-    else match (norm_base r (fst v), snd v) with
-         | (BBranch b, []) =>                         (* dirty branch: `db/branch` is the branch's working set *)
-           match branch_working r b with
-           | Some w => match assoc t (d_schema w) with
-                       | Some cols => ans_eqb a (ARows cols (rows_of t (d_data w)))
-                       | None => is_error a
-                       end
-           | None => is_error a
-           end
-         | _ => match a with ARows _ _ | AHist _ _ => want_commit r v t a | _ => true end   (* refusing is fine; rows must be the right ones *)
-         end
-t    if revdb_denotes r v then want_commit r v t a
-    else match (norm_base r (fst v), snd v) with
-         | (BBranch b, []) =>                         (* dirty branch: `db/branch` is the branch's working set *)
-           match branch_working r b with
-           | Some w => match assoc t (d_schema w) with
-                       | Some cols => ans_eqb a (ARows cols (rows_of t (d_data w)))
-                       | None => is_error a
-                       end
-           | None => is_error a
-           end
-         | _ => match a with ARows _ _ | AHist _ _ => want_commit r v t a | _ => true end   (* refusing is fine; rows must be the right ones *)
-         end
-r    if revdb_denotes r v then want_commit r v t a
-    else match (norm_base r (fst v), snd v) with
-         | (BBranch b, []) =>                         (* dirty branch: `db/branch` is the branch's working set *)
-           match branch_working r b with
-           | Some w => match assoc t (d_schema w) with
-                       | Some cols => ans_eqb a (ARows cols (rows_of t (d_data w)))
-                       | None => is_error a
-                       end
-           | None => is_error a
-           end
-         | _ => match a with ARows _ _ | AHist _ _ => want_commit r v t a | _ => true end   (* refusing is fine; rows must be the right ones *)
-         end
-u    if revdb_denotes r v then want_commit r v t a
-    else match (norm_base r (fst v), snd v) with
-         | (BBranch b, []) =>                         (* dirty branch: `db/branch` is the branch's working set *)
-           match branch_working r b with
-           | Some w => match assoc t (d_schema w) with
-                       | Some cols => ans_eqb a (ARows cols (rows_of t (d_data w)))
-                       | None => is_error a
-                       end
-           | None => is_error a
-           end
-         | _ => match a with ARows _ _ | AHist _ _ => want_commit r v t a | _ => true end   (* refusing is fine; rows must be the right ones *)
-         end
-e    if revdb_denotes r v then want_commit r v t a
-    else match (norm_base r (fst v), snd v) with
-         | (BBranch b, []) =>                         (* dirty branch: `db/branch` is the branch's working set *)
-           match branch_working r b with
-           | Some w => match assoc t (d_schema w) with
-                       | Some cols => ans_eqb a (ARows cols (rows_of t (d_data w)))
-                       | None => is_error a
-                       end
-           | None => is_error a
-           end
-         | _ => match a with ARows _ _ | AHist _ _ => want_commit r v t a | _ => true end   (* refusing is fine; rows must be the right ones *)
-         end
-
-    if revdb_denotes r v then want_commit r v t a
-    else match (norm_base r (fst v), snd v) with
-         | (BBranch b, []) =>                         (* dirty branch: `db/branch` is the branch's working set *)
-           match branch_working r b with
-           | Some w => match assoc t (d_schema w) with
-                       | Some cols => ans_eqb a (ARows cols (rows_of t (d_data w)))
-                       | None => is_error a
-                       end
-           | None => is_error a
-           end
-         | _ => match a with ARows _ _ | AHist _ _ => want_commit r v t a | _ => true end   (* refusing is fine; rows must be the right ones *)
-         end
-     if revdb_denotes r v then want_commit r v t a
-    else match (norm_base r (fst v), snd v) with
-         | (BBranch b, []) =>                         (* dirty branch: `db/branch` is the branch's working set *)
-           match branch_working r b with
-           | Some w => match assoc t (d_schema w) with
-                       | Some cols => ans_eqb a (ARows cols (rows_of t (d_data w)))
-                       | None => is_error a
-                       end
-           | None => is_error a
-           end
-         | _ => match a with ARows _ _ | AHist _ _ => want_commit r v t a | _ => true end   (* refusing is fine; rows must be the right ones *)
-         end
-     if revdb_denotes r v then want_commit r v t a
-    else match (norm_base r (fst v), snd v) with
-         | (BBranch b, []) =>                         (* dirty branch: `db/branch` is the branch's working set *)
-           match branch_working r b with
-           | Some w => match assoc t (d_schema w) with
-                       | Some cols => ans_eqb a (ARows cols (rows_of t (d_data w)))
-                       | None => is_error a
-                       end
-           | None => is_error a
-           end
-         | _ => match a with ARows _ _ | AHist _ _ => want_commit r v t a | _ => true end   (* refusing is fine; rows must be the right ones *)
-         end
-|    if revdb_denotes r v then want_commit r v t a
-    else match (norm_base r (fst v), snd v) with
-         | (BBranch b, []) =>                         (* dirty branch: `db/branch` is the branch's working set *)
-           match branch_working r b with
-           | Some w => match assoc t (d_schema w) with
-                       | Some cols => ans_eqb a (ARows cols (rows_of t (d_data w)))
-                       | None => is_error a
-                       end
-           | None => is_error a
-           end
-         | _ => match a with ARows _ _ | AHist _ _ => want_commit r v t a | _ => true end   (* refusing is fine; rows must be the right ones *)
-         end
-     if revdb_denotes r v then want_commit r v t a
-    else match (norm_base r (fst v), snd v) with
-         | (BBranch b, []) =>                         (* dirty branch: `db/branch` is the branch's working set *)
-           match branch_working r b with
-           | Some w => match assoc t (d_schema w) with
-                       | Some cols => ans_eqb a (ARows cols (rows_of t (d_data w)))
-                       | None => is_error a
-                       end
-           | None => is_error a
-           end
-         | _ => match a with ARows _ _ | AHist _ _ => want_commit r v t a | _ => true end   (* refusing is fine; rows must be the right ones *)
-         end
-q    if revdb_denotes r v then want_commit r v t a
-    else match (norm_base r (fst v), snd v) with
-         | (BBranch b, []) =>                         (* dirty branch: `db/branch` is the branch's working set *)
-           match branch_working r b with
-           | Some w => match assoc t (d_schema w) with
-                       | Some cols => ans_eqb a (ARows cols (rows_of t (d_data w)))
-                       | None => is_error a
-                       end
-           | None => is_error a
-           end
-         | _ => match a with ARows _ _ | AHist _ _ => want_commit r v t a | _ => true end   (* refusing is fine; rows must be the right ones *)
-         end
-     if revdb_denotes r v then want_commit r v t a
-    else match (norm_base r (fst v), snd v) with
-         | (BBranch b, []) =>                         (* dirty branch: `db/branch` is the branch's working set *)
-           match branch_working r b with
-           | Some w => match assoc t (d_schema w) with
-                       | Some cols => ans_eqb a (ARows cols (rows_of t (d_data w)))
-                       | None => is_error a
-                       end
-           | None => is_error a
-           end
-         | _ => match a with ARows _ _ | AHist _ _ => want_commit r v t a | _ => true end   (* refusing is fine; rows must be the right ones *)
-         end
-:    if revdb_denotes r v then want_commit r v t a
-    else match (norm_base r (fst v), snd v) with
-         | (BBranch b, []) =>                         (* dirty branch: `db/branch` is the branch's working set *)
-           match branch_working r b with
-           | Some w => match assoc t (d_schema w) with
-                       | Some cols => ans_eqb a (ARows cols (rows_of t (d_data w)))
-                       | None => is_error a
-                       end
-           | None => is_error a
-           end
-         | _ => match a with ARows _ _ | AHist _ _ => want_commit r v t a | _ => true end   (* refusing is fine; rows must be the right ones *)
-         end
-:    if revdb_denotes r v then want_commit r v t a
-    else match (norm_base r (fst v), snd v) with
-         | (BBranch b, []) =>                         (* dirty branch: `db/branch` is the branch's working set *)
-           match branch_working r b with
-           | Some w => match assoc t (d_schema w) with
-                       | Some cols => ans_eqb a (ARows cols (rows_of t (d_data w)))
-                       | None => is_error a
-                       end
-           | None => is_error a
-           end
-         | _ => match a with ARows _ _ | AHist _ _ => want_commit r v t a | _ => true end   (* refusing is fine; rows must be the right ones *)
-         end
-     if revdb_denotes r v then want_commit r v t a
-    else match (norm_base r (fst v), snd v) with
-         | (BBranch b, []) =>                         (* dirty branch: `db/branch` is the branch's working set *)
-           match branch_working r b with
-           | Some w => match assoc t (d_schema w) with
-                       | Some cols => ans_eqb a (ARows cols (rows_of t (d_data w)))
-                       | None => is_error a
-                       end
-           | None => is_error a
-           end
-         | _ => match a with ARows _ _ | AHist _ _ => want_commit r v t a | _ => true end   (* refusing is fine; rows must be the right ones *)
-         end
-q    if revdb_denotes r v then want_commit r v t a
-    else match (norm_base r (fst v), snd v) with
-         | (BBranch b, []) =>                         (* dirty branch: `db/branch` is the branch's working set *)
-           match branch_working r b with
-           | Some w => match assoc t (d_schema w) with
-                       | Some cols => ans_eqb a (ARows cols (rows_of t (d_data w)))
-                       | None => is_error a
-                       end
-           | None => is_error a
-           end
-         | _ => match a with ARows _ _ | AHist _ _ => want_commit r v t a | _ => true end   (* refusing is fine; rows must be the right ones *)
-         end
-s    if revdb_denotes r v then want_commit r v t a
-    else match (norm_base r (fst v), snd v) with
-         | (BBranch b, []) =>                         (* dirty branch: `db/branch` is the branch's working set *)
-           match branch_working r b with
-           | Some w => match assoc t (d_schema w) with
-                       | Some cols => ans_eqb a (ARows cols (rows_of t (d_data w)))
-                       | None => is_error a
-                       end
-           | None => is_error a
-           end
-         | _ => match a with ARows _ _ | AHist _ _ => want_commit r v t a | _ => true end   (* refusing is fine; rows must be the right ones *)
-         end
-'    if revdb_denotes r v then want_commit r v t a
-    else match (norm_base r (fst v), snd v) with
-         | (BBranch b, []) =>                         (* dirty branch: `db/branch` is the branch's working set *)
-           match branch_working r b with
-           | Some w => match assoc t (d_schema w) with
-                       | Some cols => ans_eqb a (ARows cols (rows_of t (d_data w)))
-                       | None => is_error a
-                       end
-           | None => is_error a
-           end
-         | _ => match a with ARows _ _ | AHist _ _ => want_commit r v t a | _ => true end   (* refusing is fine; rows must be the right ones *)
-         end
-,    if revdb_denotes r v then want_commit r v t a
-    else match (norm_base r (fst v), snd v) with
-         | (BBranch b, []) =>                         (* dirty branch: `db/branch` is the branch's working set *)
-           match branch_working r b with
-           | Some w => match assoc t (d_schema w) with
-                       | Some cols => ans_eqb a (ARows cols (rows_of t (d_data w)))
-                       | None => is_error a
-                       end
-           | None => is_error a
-           end
-         | _ => match a with ARows _ _ | AHist _ _ => want_commit r v t a | _ => true end   (* refusing is fine; rows must be the right ones *)
-         end
-     if revdb_denotes r v then want_commit r v t a
-    else match (norm_base r (fst v), snd v) with
-         | (BBranch b, []) =>                         (* dirty branch: `db/branch` is the branch's working set *)
-           match branch_working r b with
-           | Some w => match assoc t (d_schema w) with
-                       | Some cols => ans_eqb a (ARows cols (rows_of t (d_data w)))
-                       | None => is_error a
-                       end
-           | None => is_error a
-           end
-         | _ => match a with ARows _ _ | AHist _ _ => want_commit r v t a | _ => true end   (* refusing is fine; rows must be the right ones *)
-         end
-a    if revdb_denotes r v then want_commit r v t a
-    else match (norm_base r (fst v), snd v) with
-         | (BBranch b, []) =>                         (* dirty branch: `db/branch` is the branch's working set *)
-           match branch_working r b with
-           | Some w => match assoc t (d_schema w) with
-                       | Some cols => ans_eqb a (ARows cols (rows_of t (d_data w)))
-                       | None => is_error a
-                       end
-           | None => is_error a
-           end
-         | _ => match a with ARows _ _ | AHist _ _ => want_commit r v t a | _ => true end   (* refusing is fine; rows must be the right ones *)
-         end
-     if revdb_denotes r v then want_commit r v t a
-    else match (norm_base r (fst v), snd v) with
-         | (BBranch b, []) =>                         (* dirty branch: `db/branch` is the branch's working set *)
-           match branch_working r b with
-           | Some w => match assoc t (d_schema w) with
-                       | Some cols => ans_eqb a (ARows cols (rows_of t (d_data w)))
-                       | None => is_error a
-                       end
-           | None => is_error a
-           end
-         | _ => match a with ARows _ _ | AHist _ _ => want_commit r v t a | _ => true end   (* refusing is fine; rows must be the right ones *)
-         end
-:    if revdb_denotes r v then want_commit r v t a
-    else match (norm_base r (fst v), snd v) with
-         | (BBranch b, []) =>                         (* dirty branch: `db/branch` is the branch's working set *)
-           match branch_working r b with
-           | Some w => match assoc t (d_schema w) with
-                       | Some cols => ans_eqb a (ARows cols (rows_of t (d_data w)))
-                       | None => is_error a
-                       end
-           | None => is_error a
-           end
-         | _ => match a with ARows _ _ | AHist _ _ => want_commit r v t a | _ => true end   (* refusing is fine; rows must be the right ones *)
-         end
-:    if revdb_denotes r v then want_commit r v t a
-    else match (norm_base r (fst v), snd v) with
-         | (BBranch b, []) =>                         (* dirty branch: `db/branch` is the branch's working set *)
-           match branch_working r b with
-           | Some w => match assoc t (d_schema w) with
-                       | Some cols => ans_eqb a (ARows cols (rows_of t (d_data w)))
-                       | None => is_error a
-                       end
-           | None => is_error a
-           end
-         | _ => match a with ARows _ _ | AHist _ _ => want_commit r v t a | _ => true end   (* refusing is fine; rows must be the right ones *)
-         end
-     if revdb_denotes r v then want_commit r v t a
-    else match (norm_base r (fst v), snd v) with
-         | (BBranch b, []) =>                         (* dirty branch: `db/branch` is the branch's working set *)
-           match branch_working r b with
-           | Some w => match assoc t (d_schema w) with
-                       | Some cols => ans_eqb a (ARows cols (rows_of t (d_data w)))
-                       | None => is_error a
-                       end
-           | None => is_error a
-           end
-         | _ => match a with ARows _ _ | AHist _ _ => want_commit r v t a | _ => true end   (* refusing is fine; rows must be the right ones *)
-         end
-o    if revdb_denotes r v then want_commit r v t a
-    else match (norm_base r (fst v), snd v) with
-         | (BBranch b, []) =>                         (* dirty branch: `db/branch` is the branch's working set *)
-           match branch_working r b with
-           | Some w => match assoc t (d_schema w) with
-                       | Some cols => ans_eqb a (ARows cols (rows_of t (d_data w)))
-                       | None => is_error a
-                       end
-           | None => is_error a
-           end
-         | _ => match a with ARows _ _ | AHist _ _ => want_commit r v t a | _ => true end   (* refusing is fine; rows must be the right ones *)
-         end
-'    if revdb_denotes r v then want_commit r v t a
-    else match (norm_base r (fst v), snd v) with
-         | (BBranch b, []) =>                         (* dirty branch: `db/branch` is the branch's working set *)
-           match branch_working r b with
-           | Some w => match assoc t (d_schema w) with
-                       | Some cols => ans_eqb a (ARows cols (rows_of t (d_data w)))
-                       | None => is_error a
-                       end
-           | None => is_error a
-           end
-         | _ => match a with ARows _ _ | AHist _ _ => want_commit r v t a | _ => true end   (* refusing is fine; rows must be the right ones *)
-         end
-     if revdb_denotes r v then want_commit r v t a
-    else match (norm_base r (fst v), snd v) with
-         | (BBranch b, []) =>                         (* dirty branch: `db/branch` is the branch's working set *)
-           match branch_working r b with
-           | Some w => match assoc t (d_schema w) with
-                       | Some cols => ans_eqb a (ARows cols (rows_of t (d_data w)))
-                       | None => is_error a
-                       end
-           | None => is_error a
-           end
-         | _ => match a with ARows _ _ | AHist _ _ => want_commit r v t a | _ => true end   (* refusing is fine; rows must be the right ones *)
-         end
-=    if revdb_denotes r v then want_commit r v t a
-    else match (norm_base r (fst v), snd v) with
-         | (BBranch b, []) =>                         (* dirty branch: `db/branch` is the branch's working set *)
-           match branch_working r b with
-           | Some w => match assoc t (d_schema w) with
-                       | Some cols => ans_eqb a (ARows cols (rows_of t (d_data w)))
-                       | None => is_error a
-                       end
-           | None => is_error a
-           end
-         | _ => match a with ARows _ _ | AHist _ _ => want_commit r v t a | _ => true end   (* refusing is fine; rows must be the right ones *)
-         end
->    if revdb_denotes r v then want_commit r v t a
-    else match (norm_base r (fst v), snd v) with
-         | (BBranch b, []) =>                         (* dirty branch: `db/branch` is the branch's working set *)
-           match branch_working r b with
-           | Some w => match assoc t (d_schema w) with
-                       | Some cols => ans_eqb a (ARows cols (rows_of t (d_data w)))
-                       | None => is_error a
-                       end
-           | None => is_error a
-           end
-         | _ => match a with ARows _ _ | AHist _ _ => want_commit r v t a | _ => true end   (* refusing is fine; rows must be the right ones *)
-         end
-     if revdb_denotes r v then want_commit r v t a
-    else match (norm_base r (fst v), snd v) with
-         | (BBranch b, []) =>                         (* dirty branch: `db/branch` is the branch's working set *)
-           match branch_working r b with
-           | Some w => match assoc t (d_schema w) with
-                       | Some cols => ans_eqb a (ARows cols (rows_of t (d_data w)))
-                       | None => is_error a
-                       end
-           | None => is_error a
-           end
-         | _ => match a with ARows _ _ | AHist _ _ => want_commit r v t a | _ => true end   (* refusing is fine; rows must be the right ones *)
-         end
-p    if revdb_denotes r v then want_commit r v t a
-    else match (norm_base r (fst v), snd v) with
-         | (BBranch b, []) =>                         (* dirty branch: `db/branch` is the branch's working set *)
-           match branch_working r b with
-           | Some w => match assoc t (d_schema w) with
-                       | Some cols => ans_eqb a (ARows cols (rows_of t (d_data w)))
-                       | None => is_error a
-                       end
-           | None => is_error a
-           end
-         | _ => match a with ARows _ _ | AHist _ _ => want_commit r v t a | _ => true end   (* refusing is fine; rows must be the right ones *)
-         end
-r    if revdb_denotes r v then want_commit r v t a
-    else match (norm_base r (fst v), snd v) with
-         | (BBranch b, []) =>                         (* dirty branch: `db/branch` is the branch's working set *)
-           match branch_working r b with
-           | Some w => match assoc t (d_schema w) with
-                       | Some cols => ans_eqb a (ARows cols (rows_of t (d_data w)))
-                       | None => is_error a
-                       end
-           | None => is_error a
-           end
-         | _ => match a with ARows _ _ | AHist _ _ => want_commit r v t a | _ => true end   (* refusing is fine; rows must be the right ones *)
-         end
-o    if revdb_denotes r v then want_commit r v t a
-    else match (norm_base r (fst v), snd v) with
-         | (BBranch b, []) =>                         (* dirty branch: `db/branch` is the branch's working set *)
-           match branch_working r b with
-           | Some w => match assoc t (d_schema w) with
-                       | Some cols => ans_eqb a (ARows cols (rows_of t (d_data w)))
-                       | None => is_error a
-                       end
-           | None => is_error a
-           end
-         | _ => match a with ARows _ _ | AHist _ _ => want_commit r v t a | _ => true end   (* refusing is fine; rows must be the right ones *)
-         end
-p    if revdb_denotes r v then want_commit r v t a
-    else match (norm_base r (fst v), snd v) with
-         | (BBranch b, []) =>                         (* dirty branch: `db/branch` is the branch's working set *)
-           match branch_working r b with
-           | Some w => match assoc t (d_schema w) with
-                       | Some cols => ans_eqb a (ARows cols (rows_of t (d_data w)))
-                       | None => is_error a
-                       end
-           | None => is_error a
-           end
-         | _ => match a with ARows _ _ | AHist _ _ => want_commit r v t a | _ => true end   (* refusing is fine; rows must be the right ones *)
-         end
-_    if revdb_denotes r v then want_commit r v t a
-    else match (norm_base r (fst v), snd v) with
-         | (BBranch b, []) =>                         (* dirty branch: `db/branch` is the branch's working set *)
-           match branch_working r b with
-           | Some w => match assoc t (d_schema w) with
-                       | Some cols => ans_eqb a (ARows cols (rows_of t (d_data w)))
-                       | None => is_error a
-                       end
-           | None => is_error a
-           end
-         | _ => match a with ARows _ _ | AHist _ _ => want_commit r v t a | _ => true end   (* refusing is fine; rows must be the right ones *)
-         end
-a    if revdb_denotes r v then want_commit r v t a
-    else match (norm_base r (fst v), snd v) with
-         | (BBranch b, []) =>                         (* dirty branch: `db/branch` is the branch's working set *)
-           match branch_working r b with
-           | Some w => match assoc t (d_schema w) with
-                       | Some cols => ans_eqb a (ARows cols (rows_of t (d_data w)))
-                       | None => is_error a
-                       end
-           | None => is_error a
-           end
-         | _ => match a with ARows _ _ | AHist _ _ => want_commit r v t a | _ => true end   (* refusing is fine; rows must be the right ones *)
-         end
-n    if revdb_denotes r v then want_commit r v t a
-    else match (norm_base r (fst v), snd v) with
-         | (BBranch b, []) =>                         (* dirty branch: `db/branch` is the branch's working set *)
-           match branch_working r b with
-           | Some w => match assoc t (d_schema w) with
-                       | Some cols => ans_eqb a (ARows cols (rows_of t (d_data w)))
-                       | None => is_error a
-                       end
-           | None => is_error a
-           end
-         | _ => match a with ARows _ _ | AHist _ _ => want_commit r v t a | _ => true end   (* refusing is fine; rows must be the right ones *)
-         end
-s    if revdb_denotes r v then want_commit r v t a
-    else match (norm_base r (fst v), snd v) with
-         | (BBranch b, []) =>                         (* dirty branch: `db/branch` is the branch's working set *)
-           match branch_working r b with
-           | Some w => match assoc t (d_schema w) with
-                       | Some cols => ans_eqb a (ARows cols (rows_of t (d_data w)))
-                       | None => is_error a
-                       end
-           | None => is_error a
-           end
-         | _ => match a with ARows _ _ | AHist _ _ => want_commit r v t a | _ => true end   (* refusing is fine; rows must be the right ones *)
-         end
-w    if revdb_denotes r v then want_commit r v t a
-    else match (norm_base r (fst v), snd v) with
-         | (BBranch b, []) =>                         (* dirty branch: `db/branch` is the branch's working set *)
-           match branch_working r b with
-           | Some w => match assoc t (d_schema w) with
-                       | Some cols => ans_eqb a (ARows cols (rows_of t (d_data w)))
-                       | None => is_error a
-                       end
-           | None => is_error a
-           end
-         | _ => match a with ARows _ _ | AHist _ _ => want_commit r v t a | _ => true end   (* refusing is fine; rows must be the right ones *)
-         end
-e    if revdb_denotes r v then want_commit r v t a
-    else match (norm_base r (fst v), snd v) with
-         | (BBranch b, []) =>                         (* dirty branch: `db/branch` is the branch's working set *)
-           match branch_working r b with
-           | Some w => match assoc t (d_schema w) with
-                       | Some cols => ans_eqb a (ARows cols (rows_of t (d_data w)))
-                       | None => is_error a
-                       end
-           | None => is_error a
-           end
-         | _ => match a with ARows _ _ | AHist _ _ => want_commit r v t a | _ => true end   (* refusing is fine; rows must be the right ones *)
-         end
-r    if revdb_denotes r v then want_commit r v t a
-    else match (norm_base r (fst v), snd v) with
-         | (BBranch b, []) =>                         (* dirty branch: `db/branch` is the branch's working set *)
-           match branch_working r b with
-           | Some w => match assoc t (d_schema w) with
-                       | Some cols => ans_eqb a (ARows cols (rows_of t (d_data w)))
-                       | None => is_error a
-                       end
-           | None => is_error a
-           end
-         | _ => match a with ARows _ _ | AHist _ _ => want_commit r v t a | _ => true end   (* refusing is fine; rows must be the right ones *)
-         end
-     if revdb_denotes r v then want_commit r v t a
-    else match (norm_base r (fst v), snd v) with
-         | (BBranch b, []) =>                         (* dirty branch: `db/branch` is the branch's working set *)
-           match branch_working r b with
-           | Some w => match assoc t (d_schema w) with
-                       | Some cols => ans_eqb a (ARows cols (rows_of t (d_data w)))
-                       | None => is_error a
-                       end
-           | None => is_error a
-           end
-         | _ => match a with ARows _ _ | AHist _ _ => want_commit r v t a | _ => true end   (* refusing is fine; rows must be the right ones *)
-         end
-r    if revdb_denotes r v then want_commit r v t a
-    else match (norm_base r (fst v), snd v) with
-         | (BBranch b, []) =>                         (* dirty branch: `db/branch` is the branch's working set *)
-           match branch_working r b with
-           | Some w => match assoc t (d_schema w) with
-                       | Some cols => ans_eqb a (ARows cols (rows_of t (d_data w)))
-                       | None => is_error a
-                       end
-           | None => is_error a
-           end
-         | _ => match a with ARows _ _ | AHist _ _ => want_commit r v t a | _ => true end   (* refusing is fine; rows must be the right ones *)
-         end
-     if revdb_denotes r v then want_commit r v t a
-    else match (norm_base r (fst v), snd v) with
-         | (BBranch b, []) =>                         (* dirty branch: `db/branch` is the branch's working set *)
-           match branch_working r b with
-           | Some w => match assoc t (d_schema w) with
-                       | Some cols => ans_eqb a (ARows cols (rows_of t (d_data w)))
-                       | None => is_error a
-                       end
-           | None => is_error a
-           end
-         | _ => match a with ARows _ _ | AHist _ _ => want_commit r v t a | _ => true end   (* refusing is fine; rows must be the right ones *)
-         end
-q    if revdb_denotes r v then want_commit r v t a
-    else match (norm_base r (fst v), snd v) with
-         | (BBranch b, []) =>                         (* dirty branch: `db/branch` is the branch's working set *)
-           match branch_working r b with
-           | Some w => match assoc t (d_schema w) with
-                       | Some cols => ans_eqb a (ARows cols (rows_of t (d_data w)))
-                       | None => is_error a
-                       end
-           | None => is_error a
-           end
-         | _ => match a with ARows _ _ | AHist _ _ => want_commit r v t a | _ => true end   (* refusing is fine; rows must be the right ones *)
-         end
-     if revdb_denotes r v then want_commit r v t a
-    else match (norm_base r (fst v), snd v) with
-         | (BBranch b, []) =>                         (* dirty branch: `db/branch` is the branch's working set *)
-           match branch_working r b with
-           | Some w => match assoc t (d_schema w) with
-                       | Some cols => ans_eqb a (ARows cols (rows_of t (d_data w)))
-                       | None => is_error a
-                       end
-           | None => is_error a
-           end
-         | _ => match a with ARows _ _ | AHist _ _ => want_commit r v t a | _ => true end   (* refusing is fine; rows must be the right ones *)
-         end
-a    if revdb_denotes r v then want_commit r v t a
-    else match (norm_base r (fst v), snd v) with
-         | (BBranch b, []) =>                         (* dirty branch: `db/branch` is the branch's working set *)
-           match branch_working r b with
-           | Some w => match assoc t (d_schema w) with
-                       | Some cols => ans_eqb a (ARows cols (rows_of t (d_data w)))
-                       | None => is_error a
-                       end
-           | None => is_error a
-           end
-         | _ => match a with ARows _ _ | AHist _ _ => want_commit r v t a | _ => true end   (* refusing is fine; rows must be the right ones *)
-         end
-     if revdb_denotes r v then want_commit r v t a
-    else match (norm_base r (fst v), snd v) with
-         | (BBranch b, []) =>                         (* dirty branch: `db/branch` is the branch's working set *)
-           match branch_working r b with
-           | Some w => match assoc t (d_schema w) with
-                       | Some cols => ans_eqb a (ARows cols (rows_of t (d_data w)))
-                       | None => is_error a
-                       end
-           | None => is_error a
-           end
-         | _ => match a with ARows _ _ | AHist _ _ => want_commit r v t a | _ => true end   (* refusing is fine; rows must be the right ones *)
-         end
-&    if revdb_denotes r v then want_commit r v t a
-    else match (norm_base r (fst v), snd v) with
-         | (BBranch b, []) =>                         (* dirty branch: `db/branch` is the branch's working set *)
-           match branch_working r b with
-           | Some w => match assoc t (d_schema w) with
-                       | Some cols => ans_eqb a (ARows cols (rows_of t (d_data w)))
-                       | None => is_error a
-                       end
-           | None => is_error a
-           end
-         | _ => match a with ARows _ _ | AHist _ _ => want_commit r v t a | _ => true end   (* refusing is fine; rows must be the right ones *)
-         end
-&    if revdb_denotes r v then want_commit r v t a
-    else match (norm_base r (fst v), snd v) with
-         | (BBranch b, []) =>                         (* dirty branch: `db/branch` is the branch's working set *)
-           match branch_working r b with
-           | Some w => match assoc t (d_schema w) with
-                       | Some cols => ans_eqb a (ARows cols (rows_of t (d_data w)))
-                       | None => is_error a
-                       end
-           | None => is_error a
-           end
-         | _ => match a with ARows _ _ | AHist _ _ => want_commit r v t a | _ => true end   (* refusing is fine; rows must be the right ones *)
-         end
-     if revdb_denotes r v then want_commit r v t a
-    else match (norm_base r (fst v), snd v) with
-         | (BBranch b, []) =>                         (* dirty branch: `db/branch` is the branch's working set *)
-           match branch_working r b with
-           | Some w => match assoc t (d_schema w) with
-                       | Some cols => ans_eqb a (ARows cols (rows_of t (d_data w)))
-                       | None => is_error a
-                       end
-           | None => is_error a
-           end
-         | _ => match a with ARows _ _ | AHist _ _ => want_commit r v t a | _ => true end   (* refusing is fine; rows must be the right ones *)
-         end
-p    if revdb_denotes r v then want_commit r v t a
-    else match (norm_base r (fst v), snd v) with
-         | (BBranch b, []) =>                         (* dirty branch: `db/branch` is the branch's working set *)
-           match branch_working r b with
-           | Some w => match assoc t (d_schema w) with
-                       | Some cols => ans_eqb a (ARows cols (rows_of t (d_data w)))
-                       | None => is_error a
-                       end
-           | None => is_error a
-           end
-         | _ => match a with ARows _ _ | AHist _ _ => want_commit r v t a | _ => true end   (* refusing is fine; rows must be the right ones *)
-         end
-r    if revdb_denotes r v then want_commit r v t a
-    else match (norm_base r (fst v), snd v) with
-         | (BBranch b, []) =>                         (* dirty branch: `db/branch` is the branch's working set *)
-           match branch_working r b with
-           | Some w => match assoc t (d_schema w) with
-                       | Some cols => ans_eqb a (ARows cols (rows_of t (d_data w)))
-                       | None => is_error a
-                       end
-           | None => is_error a
-           end
-         | _ => match a with ARows _ _ | AHist _ _ => want_commit r v t a | _ => true end   (* refusing is fine; rows must be the right ones *)
-         end
-o    if revdb_denotes r v then want_commit r v t a
-    else match (norm_base r (fst v), snd v) with
-         | (BBranch b, []) =>                         (* dirty branch: `db/branch` is the branch's working set *)
-           match branch_working r b with
-           | Some w => match assoc t (d_schema w) with
-                       | Some cols => ans_eqb a (ARows cols (rows_of t (d_data w)))
-                       | None => is_error a
-                       end
-           | None => is_error a
-           end
-         | _ => match a with ARows _ _ | AHist _ _ => want_commit r v t a | _ => true end   (* refusing is fine; rows must be the right ones *)
-         end
-p    if revdb_denotes r v then want_commit r v t a
-    else match (norm_base r (fst v), snd v) with
-         | (BBranch b, []) =>                         (* dirty branch: `db/branch` is the branch's working set *)
-           match branch_working r b with
-           | Some w => match assoc t (d_schema w) with
-                       | Some cols => ans_eqb a (ARows cols (rows_of t (d_data w)))
-                       | None => is_error a
-                       end
-           | None => is_error a
-           end
-         | _ => match a with ARows _ _ | AHist _ _ => want_commit r v t a | _ => true end   (* refusing is fine; rows must be the right ones *)
-         end
-_    if revdb_denotes r v then want_commit r v t a
-    else match (norm_base r (fst v), snd v) with
-         | (BBranch b, []) =>                         (* dirty branch: `db/branch` is the branch's working set *)
-           match branch_working r b with
-           | Some w => match assoc t (d_schema w) with
-                       | Some cols => ans_eqb a (ARows cols (rows_of t (d_data w)))
-                       | None => is_error a
-                       end
-           | None => is_error a
-           end
-         | _ => match a with ARows _ _ | AHist _ _ => want_commit r v t a | _ => true end   (* refusing is fine; rows must be the right ones *)
-         end
-a    if revdb_denotes r v then want_commit r v t a
-    else match (norm_base r (fst v), snd v) with
-         | (BBranch b, []) =>                         (* dirty branch: `db/branch` is the branch's working set *)
-           match branch_working r b with
-           | Some w => match assoc t (d_schema w) with
-                       | Some cols => ans_eqb a (ARows cols (rows_of t (d_data w)))
-                       | None => is_error a
-                       end
-           | None => is_error a
-           end
-         | _ => match a with ARows _ _ | AHist _ _ => want_commit r v t a | _ => true end   (* refusing is fine; rows must be the right ones *)
-         end
-l    if revdb_denotes r v then want_commit r v t a
-    else match (norm_base r (fst v), snd v) with
-         | (BBranch b, []) =>                         (* dirty branch: `db/branch` is the branch's working set *)
-           match branch_working r b with
-           | Some w => match assoc t (d_schema w) with
-                       | Some cols => ans_eqb a (ARows cols (rows_of t (d_data w)))
-                       | None => is_error a
-                       end
-           | None => is_error a
-           end
-         | _ => match a with ARows _ _ | AHist _ _ => want_commit r v t a | _ => true end   (* refusing is fine; rows must be the right ones *)
-         end
-l    if revdb_denotes r v then want_commit r v t a
-    else match (norm_base r (fst v), snd v) with
-         | (BBranch b, []) =>                         (* dirty branch: `db/branch` is the branch's working set *)
-           match branch_working r b with
-           | Some w => match assoc t (d_schema w) with
-                       | Some cols => ans_eqb a (ARows cols (rows_of t (d_data w)))
-                       | None => is_error a
-                       end
-           | None => is_error a
-           end
-         | _ => match a with ARows _ _ | AHist _ _ => want_commit r v t a | _ => true end   (* refusing is fine; rows must be the right ones *)
-         end
-     if revdb_denotes r v then want_commit r v t a
-    else match (norm_base r (fst v), snd v) with
-         | (BBranch b, []) =>                         (* dirty branch: `db/branch` is the branch's working set *)
-           match branch_working r b with
-           | Some w => match assoc t (d_schema w) with
-                       | Some cols => ans_eqb a (ARows cols (rows_of t (d_data w)))
-                       | None => is_error a
-                       end
-           | None => is_error a
-           end
-         | _ => match a with ARows _ _ | AHist _ _ => want_commit r v t a | _ => true end   (* refusing is fine; rows must be the right ones *)
-         end
-r    if revdb_denotes r v then want_commit r v t a
-    else match (norm_base r (fst v), snd v) with
-         | (BBranch b, []) =>                         (* dirty branch: `db/branch` is the branch's working set *)
-           match branch_working r b with
-           | Some w => match assoc t (d_schema w) with
-                       | Some cols => ans_eqb a (ARows cols (rows_of t (d_data w)))
-                       | None => is_error a
-                       end
-           | None => is_error a
-           end
-         | _ => match a with ARows _ _ | AHist _ _ => want_commit r v t a | _ => true end   (* refusing is fine; rows must be the right ones *)
-         end
-     if revdb_denotes r v then want_commit r v t a
-    else match (norm_base r (fst v), snd v) with
-         | (BBranch b, []) =>                         (* dirty branch: `db/branch` is the branch's working set *)
-           match branch_working r b with
-           | Some w => match assoc t (d_schema w) with
-                       | Some cols => ans_eqb a (ARows cols (rows_of t (d_data w)))
-                       | None => is_error a
-                       end
-           | None => is_error a
-           end
-         | _ => match a with ARows _ _ | AHist _ _ => want_commit r v t a | _ => true end   (* refusing is fine; rows must be the right ones *)
-         end
-q    if revdb_denotes r v then want_commit r v t a
-    else match (norm_base r (fst v), snd v) with
-         | (BBranch b, []) =>                         (* dirty branch: `db/branch` is the branch's working set *)
-           match branch_working r b with
-           | Some w => match assoc t (d_schema w) with
-                       | Some cols => ans_eqb a (ARows cols (rows_of t (d_data w)))
-                       | None => is_error a
-                       end
-           | None => is_error a
-           end
-         | _ => match a with ARows _ _ | AHist _ _ => want_commit r v t a | _ => true end   (* refusing is fine; rows must be the right ones *)
-         end
-s    if revdb_denotes r v then want_commit r v t a
-    else match (norm_base r (fst v), snd v) with
-         | (BBranch b, []) =>                         (* dirty branch: `db/branch` is the branch's working set *)
-           match branch_working r b with
-           | Some w => match assoc t (d_schema w) with
-                       | Some cols => ans_eqb a (ARows cols (rows_of t (d_data w)))
-                       | None => is_error a
-                       end
-           | None => is_error a
-           end
-         | _ => match a with ARows _ _ | AHist _ _ => want_commit r v t a | _ => true end   (* refusing is fine; rows must be the right ones *)
-         end
-'    if revdb_denotes r v then want_commit r v t a
-    else match (norm_base r (fst v), snd v) with
-         | (BBranch b, []) =>                         (* dirty branch: `db/branch` is the branch's working set *)
-           match branch_working r b with
-           | Some w => match assoc t (d_schema w) with
-                       | Some cols => ans_eqb a (ARows cols (rows_of t (d_data w)))
-                       | None => is_error a
-                       end
-           | None => is_error a
-           end
-         | _ => match a with ARows _ _ | AHist _ _ => want_commit r v t a | _ => true end   (* refusing is fine; rows must be the right ones *)
-         end
-     if revdb_denotes r v then want_commit r v t a
-    else match (norm_base r (fst v), snd v) with
-         | (BBranch b, []) =>                         (* dirty branch: `db/branch` is the branch's working set *)
-           match branch_working r b with
-           | Some w => match assoc t (d_schema w) with
-                       | Some cols => ans_eqb a (ARows cols (rows_of t (d_data w)))
-                       | None => is_error a
-                       end
-           | None => is_error a
-           end
-         | _ => match a with ARows _ _ | AHist _ _ => want_commit r v t a | _ => true end   (* refusing is fine; rows must be the right ones *)
-         end
-o    if revdb_denotes r v then want_commit r v t a
-    else match (norm_base r (fst v), snd v) with
-         | (BBranch b, []) =>                         (* dirty branch: `db/branch` is the branch's working set *)
-           match branch_working r b with
-           | Some w => match assoc t (d_schema w) with
-                       | Some cols => ans_eqb a (ARows cols (rows_of t (d_data w)))
-                       | None => is_error a
-                       end
-           | None => is_error a
-           end
-         | _ => match a with ARows _ _ | AHist _ _ => want_commit r v t a | _ => true end   (* refusing is fine; rows must be the right ones *)
-         end
-'    if revdb_denotes r v then want_commit r v t a
-    else match (norm_base r (fst v), snd v) with
-         | (BBranch b, []) =>                         (* dirty branch: `db/branch` is the branch's working set *)
-           match branch_working r b with
-           | Some w => match assoc t (d_schema w) with
-                       | Some cols => ans_eqb a (ARows cols (rows_of t (d_data w)))
-                       | None => is_error a
-                       end
-           | None => is_error a
-           end
-         | _ => match a with ARows _ _ | AHist _ _ => want_commit r v t a | _ => true end   (* refusing is fine; rows must be the right ones *)
-         end
-
-    if revdb_denotes r v then want_commit r v t a
-    else match (norm_base r (fst v), snd v) with
-         | (BBranch b, []) =>                         (* dirty branch: `db/branch` is the branch's working set *)
-           match branch_working r b with
-           | Some w => match assoc t (d_schema w) with
-                       | Some cols => ans_eqb a (ARows cols (rows_of t (d_data w)))
-                       | None => is_error a
-                       end
-           | None => is_error a
-           end
-         | _ => match a with ARows _ _ | AHist _ _ => want_commit r v t a | _ => true end   (* refusing is fine; rows must be the right ones *)
-         end
-     if revdb_denotes r v then want_commit r v t a
-    else match (norm_base r (fst v), snd v) with
-         | (BBranch b, []) =>                         (* dirty branch: `db/branch` is the branch's working set *)
-           match branch_working r b with
-           | Some w => match assoc t (d_schema w) with
-                       | Some cols => ans_eqb a (ARows cols (rows_of t (d_data w)))
-                       | None => is_error a
-                       end
-           | None => is_error a
-           end
-         | _ => match a with ARows _ _ | AHist _ _ => want_commit r v t a | _ => true end   (* refusing is fine; rows must be the right ones *)
-         end
-     if revdb_denotes r v then want_commit r v t a
-    else match (norm_base r (fst v), snd v) with
-         | (BBranch b, []) =>                         (* dirty branch: `db/branch` is the branch's working set *)
-           match branch_working r b with
-           | Some w => match assoc t (d_schema w) with
-                       | Some cols => ans_eqb a (ARows cols (rows_of t (d_data w)))
-                       | None => is_error a
-                       end
-           | None => is_error a
-           end
-         | _ => match a with ARows _ _ | AHist _ _ => want_commit r v t a | _ => true end   (* refusing is fine; rows must be the right ones *)
-         end
-|    if revdb_denotes r v then want_commit r v t a
-    else match (norm_base r (fst v), snd v) with
-         | (BBranch b, []) =>                         (* dirty branch: `db/branch` is the branch's working set *)
-           match branch_working r b with
-           | Some w => match assoc t (d_schema w) with
-                       | Some cols => ans_eqb a (ARows cols (rows_of t (d_data w)))
-                       | None => is_error a
-                       end
-           | None => is_error a
-           end
-         | _ => match a with ARows _ _ | AHist _ _ => want_commit r v t a | _ => true end   (* refusing is fine; rows must be the right ones *)
-         end
-     if revdb_denotes r v then want_commit r v t a
-    else match (norm_base r (fst v), snd v) with
-         | (BBranch b, []) =>                         (* dirty branch: `db/branch` is the branch's working set *)
-           match branch_working r b with
-           | Some w => match assoc t (d_schema w) with
-                       | Some cols => ans_eqb a (ARows cols (rows_of t (d_data w)))
-                       | None => is_error a
-                       end
-           | None => is_error a
-           end
-         | _ => match a with ARows _ _ | AHist _ _ => want_commit r v t a | _ => true end   (* refusing is fine; rows must be the right ones *)
-         end
-_    if revdb_denotes r v then want_commit r v t a
-    else match (norm_base r (fst v), snd v) with
-         | (BBranch b, []) =>                         (* dirty branch: `db/branch` is the branch's working set *)
-           match branch_working r b with
-           | Some w => match assoc t (d_schema w) with
-                       | Some cols => ans_eqb a (ARows cols (rows_of t (d_data w)))
-                       | None => is_error a
-                       end
-           | None => is_error a
-           end
-         | _ => match a with ARows _ _ | AHist _ _ => want_commit r v t a | _ => true end   (* refusing is fine; rows must be the right ones *)
-         end
-,    if revdb_denotes r v then want_commit r v t a
-    else match (norm_base r (fst v), snd v) with
-         | (BBranch b, []) =>                         (* dirty branch: `db/branch` is the branch's working set *)
-           match branch_working r b with
-           | Some w => match assoc t (d_schema w) with
-                       | Some cols => ans_eqb a (ARows cols (rows_of t (d_data w)))
-                       | None => is_error a
-                       end
-           | None => is_error a
-           end
-         | _ => match a with ARows _ _ | AHist _ _ => want_commit r v t a | _ => true end   (* refusing is fine; rows must be the right ones *)
-         end
-     if revdb_denotes r v then want_commit r v t a
-    else match (norm_base r (fst v), snd v) with
-         | (BBranch b, []) =>                         (* dirty branch: `db/branch` is the branch's working set *)
-           match branch_working r b with
-           | Some w => match assoc t (d_schema w) with
-                       | Some cols => ans_eqb a (ARows cols (rows_of t (d_data w)))
-                       | None => is_error a
-                       end
-           | None => is_error a
-           end
-         | _ => match a with ARows _ _ | AHist _ _ => want_commit r v t a | _ => true end   (* refusing is fine; rows must be the right ones *)
-         end
-_    if revdb_denotes r v then want_commit r v t a
-    else match (norm_base r (fst v), snd v) with
-         | (BBranch b, []) =>                         (* dirty branch: `db/branch` is the branch's working set *)
-           match branch_working r b with
-           | Some w => match assoc t (d_schema w) with
-                       | Some cols => ans_eqb a (ARows cols (rows_of t (d_data w)))
-                       | None => is_error a
-                       end
-           | None => is_error a
-           end
-         | _ => match a with ARows _ _ | AHist _ _ => want_commit r v t a | _ => true end   (* refusing is fine; rows must be the right ones *)
-         end
-     if revdb_denotes r v then want_commit r v t a
-    else match (norm_base r (fst v), snd v) with
-         | (BBranch b, []) =>                         (* dirty branch: `db/branch` is the branch's working set *)
-           match branch_working r b with
-           | Some w => match assoc t (d_schema w) with
-                       | Some cols => ans_eqb a (ARows cols (rows_of t (d_data w)))
-                       | None => is_error a
-                       end
-           | None => is_error a
-           end
-         | _ => match a with ARows _ _ | AHist _ _ => want_commit r v t a | _ => true end   (* refusing is fine; rows must be the right ones *)
-         end
-=    if revdb_denotes r v then want_commit r v t a
-    else match (norm_base r (fst v), snd v) with
-         | (BBranch b, []) =>                         (* dirty branch: `db/branch` is the branch's working set *)
-           match branch_working r b with
-           | Some w => match assoc t (d_schema w) with
-                       | Some cols => ans_eqb a (ARows cols (rows_of t (d_data w)))
-                       | None => is_error a
-                       end
-           | None => is_error a
-           end
-         | _ => match a with ARows _ _ | AHist _ _ => want_commit r v t a | _ => true end   (* refusing is fine; rows must be the right ones *)
-         end
->    if revdb_denotes r v then want_commit r v t a
-    else match (norm_base r (fst v), snd v) with
-         | (BBranch b, []) =>                         (* dirty branch: `db/branch` is the branch's working set *)
-           match branch_working r b with
-           | Some w => match assoc t (d_schema w) with
-                       | Some cols => ans_eqb a (ARows cols (rows_of t (d_data w)))
-                       | None => is_error a
-                       end
-           | None => is_error a
-           end
-         | _ => match a with ARows _ _ | AHist _ _ => want_commit r v t a | _ => true end   (* refusing is fine; rows must be the right ones *)
-         end
-     if revdb_denotes r v then want_commit r v t a
-    else match (norm_base r (fst v), snd v) with
-         | (BBranch b, []) =>                         (* dirty branch: `db/branch` is the branch's working set *)
-           match branch_working r b with
-           | Some w => match assoc t (d_schema w) with
-                       | Some cols => ans_eqb a (ARows cols (rows_of t (d_data w)))
-                       | None => is_error a
-                       end
-           | None => is_error a
-           end
-         | _ => match a with ARows _ _ | AHist _ _ => want_commit r v t a | _ => true end   (* refusing is fine; rows must be the right ones *)
-         end
-f    if revdb_denotes r v then want_commit r v t a
-    else match (norm_base r (fst v), snd v) with
-         | (BBranch b, []) =>                         (* dirty branch: `db/branch` is the branch's working set *)
-           match branch_working r b with
-           | Some w => match assoc t (d_schema w) with
-                       | Some cols => ans_eqb a (ARows cols (rows_of t (d_data w)))
-                       | None => is_error a
-                       end
-           | None => is_error a
-           end
-         | _ => match a with ARows _ _ | AHist _ _ => want_commit r v t a | _ => true end   (* refusing is fine; rows must be the right ones *)
-         end
-a    if revdb_denotes r v then want_commit r v t a
-    else match (norm_base r (fst v), snd v) with
-         | (BBranch b, []) =>                         (* dirty branch: `db/branch` is the branch's working set *)
-           match branch_working r b with
-           | Some w => match assoc t (d_schema w) with
-                       | Some cols => ans_eqb a (ARows cols (rows_of t (d_data w)))
-                       | None => is_error a
-                       end
-           | None => is_error a
-           end
-         | _ => match a with ARows _ _ | AHist _ _ => want_commit r v t a | _ => true end   (* refusing is fine; rows must be the right ones *)
-         end
-l    if revdb_denotes r v then want_commit r v t a
-    else match (norm_base r (fst v), snd v) with
-         | (BBranch b, []) =>                         (* dirty branch: `db/branch` is the branch's working set *)
-           match branch_working r b with
-           | Some w => match assoc t (d_schema w) with
-                       | Some cols => ans_eqb a (ARows cols (rows_of t (d_data w)))
-                       | None => is_error a
-                       end
-           | None => is_error a
-           end
-         | _ => match a with ARows _ _ | AHist _ _ => want_commit r v t a | _ => true end   (* refusing is fine; rows must be the right ones *)
-         end
-s    if revdb_denotes r v then want_commit r v t a
-    else match (norm_base r (fst v), snd v) with
-         | (BBranch b, []) =>                         (* dirty branch: `db/branch` is the branch's working set *)
-           match branch_working r b with
-           | Some w => match assoc t (d_schema w) with
-                       | Some cols => ans_eqb a (ARows cols (rows_of t (d_data w)))
-                       | None => is_error a
-                       end
-           | None => is_error a
-           end
-         | _ => match a with ARows _ _ | AHist _ _ => want_commit r v t a | _ => true end   (* refusing is fine; rows must be the right ones *)
-         end
-e    if revdb_denotes r v then want_commit r v t a
-    else match (norm_base r (fst v), snd v) with
-         | (BBranch b, []) =>                         (* dirty branch: `db/branch` is the branch's working set *)
-           match branch_working r b with
-           | Some w => match assoc t (d_schema w) with
-                       | Some cols => ans_eqb a (ARows cols (rows_of t (d_data w)))
-                       | None => is_error a
-                       end
-           | None => is_error a
-           end
-         | _ => match a with ARows _ _ | AHist _ _ => want_commit r v t a | _ => true end   (* refusing is fine; rows must be the right ones *)
-         end
-
-    if revdb_denotes r v then want_commit r v t a
-    else match (norm_base r (fst v), snd v) with
-         | (BBranch b, []) =>                         (* dirty branch: `db/branch` is the branch's working set *)
-           match branch_working r b with
-           | Some w => match assoc t (d_schema w) with
-                       | Some cols => ans_eqb a (ARows cols (rows_of t (d_data w)))
-                       | None => is_error a
-                       end
-           | None => is_error a
-           end
-         | _ => match a with ARows _ _ | AHist _ _ => want_commit r v t a | _ => true end   (* refusing is fine; rows must be the right ones *)
-         end
-     if revdb_denotes r v then want_commit r v t a
-    else match (norm_base r (fst v), snd v) with
-         | (BBranch b, []) =>                         (* dirty branch: `db/branch` is the branch's working set *)
-           match branch_working r b with
-           | Some w => match assoc t (d_schema w) with
-                       | Some cols => ans_eqb a (ARows cols (rows_of t (d_data w)))
-                       | None => is_error a
-                       end
-           | None => is_error a
-           end
-         | _ => match a with ARows _ _ | AHist _ _ => want_commit r v t a | _ => true end   (* refusing is fine; rows must be the right ones *)
-         end
-     if revdb_denotes r v then want_commit r v t a
-    else match (norm_base r (fst v), snd v) with
-         | (BBranch b, []) =>                         (* dirty branch: `db/branch` is the branch's working set *)
-           match branch_working r b with
-           | Some w => match assoc t (d_schema w) with
-                       | Some cols => ans_eqb a (ARows cols (rows_of t (d_data w)))
-                       | None => is_error a
-                       end
-           | None => is_error a
-           end
-         | _ => match a with ARows _ _ | AHist _ _ => want_commit r v t a | _ => true end   (* refusing is fine; rows must be the right ones *)
-         end
-e    if revdb_denotes r v then want_commit r v t a
-    else match (norm_base r (fst v), snd v) with
-         | (BBranch b, []) =>                         (* dirty branch: `db/branch` is the branch's working set *)
-           match branch_working r b with
-           | Some w => match assoc t (d_schema w) with
-                       | Some cols => ans_eqb a (ARows cols (rows_of t (d_data w)))
-                       | None => is_error a
-                       end
-           | None => is_error a
-           end
-         | _ => match a with ARows _ _ | AHist _ _ => want_commit r v t a | _ => true end   (* refusing is fine; rows must be the right ones *)
-         end
-n    if revdb_denotes r v then want_commit r v t a
-    else match (norm_base r (fst v), snd v) with
-         | (BBranch b, []) =>                         (* dirty branch: `db/branch` is the branch's working set *)
-           match branch_working r b with
-           | Some w => match assoc t (d_schema w) with
-                       | Some cols => ans_eqb a (ARows cols (rows_of t (d_data w)))
-                       | None => is_error a
-                       end
-           | None => is_error a
-           end
-         | _ => match a with ARows _ _ | AHist _ _ => want_commit r v t a | _ => true end   (* refusing is fine; rows must be the right ones *)
-         end
-d    if revdb_denotes r v then want_commit r v t a
-    else match (norm_base r (fst v), snd v) with
-         | (BBranch b, []) =>                         (* dirty branch: `db/branch` is the branch's working set *)
-           match branch_working r b with
-           | Some w => match assoc t (d_schema w) with
-                       | Some cols => ans_eqb a (ARows cols (rows_of t (d_data w)))
-                       | None => is_error a
-                       end
-           | None => is_error a
-           end
-         | _ => match a with ARows _ _ | AHist _ _ => want_commit r v t a | _ => true end   (* refusing is fine; rows must be the right ones *)
-         end
-.    if revdb_denotes r v then want_commit r v t a
-    else match (norm_base r (fst v), snd v) with
-         | (BBranch b, []) =>                         (* dirty branch: `db/branch` is the branch's working set *)
-           match branch_working r b with
-           | Some w => match assoc t (d_schema w) with
-                       | Some cols => ans_eqb a (ARows cols (rows_of t (d_data w)))
-                       | None => is_error a
-                       end
-           | None => is_error a
-           end
-         | _ => match a with ARows _ _ | AHist _ _ => want_commit r v t a | _ => true end   (* refusing is fine; rows must be the right ones *)
-         end
-
-    if revdb_denotes r v then want_commit r v t a
-    else match (norm_base r (fst v), snd v) with
-         | (BBranch b, []) =>                         (* dirty branch: `db/branch` is the branch's working set *)
-           match branch_working r b with
-           | Some w => match assoc t (d_schema w) with
-                       | Some cols => ans_eqb a (ARows cols (rows_of t (d_data w)))
-                       | None => is_error a
-                       end
-           | None => is_error a
-           end
-         | _ => match a with ARows _ _ | AHist _ _ => want_commit r v t a | _ => true end   (* refusing is fine; rows must be the right ones *)
-         end
-
-    if revdb_denotes r v then want_commit r v t a
-    else match (norm_base r (fst v), snd v) with
-         | (BBranch b, []) =>                         (* dirty branch: `db/branch` is the branch's working set *)
-           match branch_working r b with
-           | Some w => match assoc t (d_schema w) with
-                       | Some cols => ans_eqb a (ARows cols (rows_of t (d_data w)))
-                       | None => is_error a
-                       end
-           | None => is_error a
-           end
-         | _ => match a with ARows _ _ | AHist _ _ => want_commit r v t a | _ => true end   (* refusing is fine; rows must be the right ones *)
-         end
-(    if revdb_denotes r v then want_commit r v t a
-    else match (norm_base r (fst v), snd v) with
-         | (BBranch b, []) =>                         (* dirty branch: `db/branch` is the branch's working set *)
-           match branch_working r b with
-           | Some w => match assoc t (d_schema w) with
-                       | Some cols => ans_eqb a (ARows cols (rows_of t (d_data w)))
-                       | None => is_error a
-                       end
-           | None => is_error a
-           end
-         | _ => match a with ARows _ _ | AHist _ _ => want_commit r v t a | _ => true end   (* refusing is fine; rows must be the right ones *)
-         end
-*    if revdb_denotes r v then want_commit r v t a
-    else match (norm_base r (fst v), snd v) with
-         | (BBranch b, []) =>                         (* dirty branch: `db/branch` is the branch's working set *)
-           match branch_working r b with
-           | Some w => match assoc t (d_schema w) with
-                       | Some cols => ans_eqb a (ARows cols (rows_of t (d_data w)))
-                       | None => is_error a
-                       end
-           | None => is_error a
-           end
-         | _ => match a with ARows _ _ | AHist _ _ => want_commit r v t a | _ => true end   (* refusing is fine; rows must be the right ones *)
-         end
-     if revdb_denotes r v then want_commit r v t a
-    else match (norm_base r (fst v), snd v) with
-         | (BBranch b, []) =>                         (* dirty branch: `db/branch` is the branch's working set *)
-           match branch_working r b with
-           | Some w => match assoc t (d_schema w) with
-                       | Some cols => ans_eqb a (ARows cols (rows_of t (d_data w)))
-                       | None => is_error a
-                       end
-           | None => is_error a
-           end
-         | _ => match a with ARows _ _ | AHist _ _ => want_commit r v t a | _ => true end   (* refusing is fine; rows must be the right ones *)
-         end
-t    if revdb_denotes r v then want_commit r v t a
-    else match (norm_base r (fst v), snd v) with
-         | (BBranch b, []) =>                         (* dirty branch: `db/branch` is the branch's working set *)
-           match branch_working r b with
-           | Some w => match assoc t (d_schema w) with
-                       | Some cols => ans_eqb a (ARows cols (rows_of t (d_data w)))
-                       | None => is_error a
-                       end
-           | None => is_error a
-           end
-         | _ => match a with ARows _ _ | AHist _ _ => want_commit r v t a | _ => true end   (* refusing is fine; rows must be the right ones *)
-         end
-h    if revdb_denotes r v then want_commit r v t a
-    else match (norm_base r (fst v), snd v) with
-         | (BBranch b, []) =>                         (* dirty branch: `db/branch` is the branch's working set *)
-           match branch_working r b with
-           | Some w => match assoc t (d_schema w) with
-                       | Some cols => ans_eqb a (ARows cols (rows_of t (d_data w)))
-                       | None => is_error a
-                       end
-           | None => is_error a
-           end
-         | _ => match a with ARows _ _ | AHist _ _ => want_commit r v t a | _ => true end   (* refusing is fine; rows must be the right ones *)
-         end
-e    if revdb_denotes r v then want_commit r v t a
-    else match (norm_base r (fst v), snd v) with
-         | (BBranch b, []) =>                         (* dirty branch: `db/branch` is the branch's working set *)
-           match branch_working r b with
-           | Some w => match assoc t (d_schema w) with
-                       | Some cols => ans_eqb a (ARows cols (rows_of t (d_data w)))
-                       | None => is_error a
-                       end
-           | None => is_error a
-           end
-         | _ => match a with ARows _ _ | AHist _ _ => want_commit r v t a | _ => true end   (* refusing is fine; rows must be the right ones *)
-         end
-     if revdb_denotes r v then want_commit r v t a
-    else match (norm_base r (fst v), snd v) with
-         | (BBranch b, []) =>                         (* dirty branch: `db/branch` is the branch's working set *)
-           match branch_working r b with
-           | Some w => match assoc t (d_schema w) with
-                       | Some cols => ans_eqb a (ARows cols (rows_of t (d_data w)))
-                       | None => is_error a
-                       end
-           | None => is_error a
-           end
-         | _ => match a with ARows _ _ | AHist _ _ => want_commit r v t a | _ => true end   (* refusing is fine; rows must be the right ones *)
-         end
-r    if revdb_denotes r v then want_commit r v t a
-    else match (norm_base r (fst v), snd v) with
-         | (BBranch b, []) =>                         (* dirty branch: `db/branch` is the branch's working set *)
-           match branch_working r b with
-           | Some w => match assoc t (d_schema w) with
-                       | Some cols => ans_eqb a (ARows cols (rows_of t (d_data w)))
-                       | None => is_error a
-                       end
-           | None => is_error a
-           end
-         | _ => match a with ARows _ _ | AHist _ _ => want_commit r v t a | _ => true end   (* refusing is fine; rows must be the right ones *)
-         end
-e    if revdb_denotes r v then want_commit r v t a
-    else match (norm_base r (fst v), snd v) with
-         | (BBranch b, []) =>                         (* dirty branch: `db/branch` is the branch's working set *)
-           match branch_working r b with
-           | Some w => match assoc t (d_schema w) with
-                       | Some cols => ans_eqb a (ARows cols (rows_of t (d_data w)))
-                       | None => is_error a
-                       end
-           | None => is_error a
-           end
-         | _ => match a with ARows _ _ | AHist _ _ => want_commit r v t a | _ => true end   (* refusing is fine; rows must be the right ones *)
-         end
-c    if revdb_denotes r v then want_commit r v t a
-    else match (norm_base r (fst v), snd v) with
-         | (BBranch b, []) =>                         (* dirty branch: `db/branch` is the branch's working set *)
-           match branch_working r b with
-           | Some w => match assoc t (d_schema w) with
-                       | Some cols => ans_eqb a (ARows cols (rows_of t (d_data w)))
-                       | None => is_error a
-                       end
-           | None => is_error a
-           end
-         | _ => match a with ARows _ _ | AHist _ _ => want_commit r v t a | _ => true end   (* refusing is fine; rows must be the right ones *)
-         end
-o    if revdb_denotes r v then want_commit r v t a
-    else match (norm_base r (fst v), snd v) with
-         | (BBranch b, []) =>                         (* dirty branch: `db/branch` is the branch's working set *)
-           match branch_working r b with
-           | Some w => match assoc t (d_schema w) with
-                       | Some cols => ans_eqb a (ARows cols (rows_of t (d_data w)))
-                       | None => is_error a
-                       end
-           | None => is_error a
-           end
-         | _ => match a with ARows _ _ | AHist _ _ => want_commit r v t a | _ => true end   (* refusing is fine; rows must be the right ones *)
-         end
-r    if revdb_denotes r v then want_commit r v t a
-    else match (norm_base r (fst v), snd v) with
-         | (BBranch b, []) =>                         (* dirty branch: `db/branch` is the branch's working set *)
-           match branch_working r b with
-           | Some w => match assoc t (d_schema w) with
-                       | Some cols => ans_eqb a (ARows cols (rows_of t (d_data w)))
-                       | None => is_error a
-                       end
-           | None => is_error a
-           end
-         | _ => match a with ARows _ _ | AHist _ _ => want_commit r v t a | _ => true end   (* refusing is fine; rows must be the right ones *)
-         end
-d    if revdb_denotes r v then want_commit r v t a
-    else match (norm_base r (fst v), snd v) with
-         | (BBranch b, []) =>                         (* dirty branch: `db/branch` is the branch's working set *)
-           match branch_working r b with
-           | Some w => match assoc t (d_schema w) with
-                       | Some cols => ans_eqb a (ARows cols (rows_of t (d_data w)))
-                       | None => is_error a
-                       end
-           | None => is_error a
-           end
-         | _ => match a with ARows _ _ | AHist _ _ => want_commit r v t a | _ => true end   (* refusing is fine; rows must be the right ones *)
-         end
-e    if revdb_denotes r v then want_commit r v t a
-    else match (norm_base r (fst v), snd v) with
-         | (BBranch b, []) =>                         (* dirty branch: `db/branch` is the branch's working set *)
-           match branch_working r b with
-           | Some w => match assoc t (d_schema w) with
-                       | Some cols => ans_eqb a (ARows cols (rows_of t (d_data w)))
-                       | None => is_error a
-                       end
-           | None => is_error a
-           end
-         | _ => match a with ARows _ _ | AHist _ _ => want_commit r v t a | _ => true end   (* refusing is fine; rows must be the right ones *)
-         end
-d    if revdb_denotes r v then want_commit r v t a
-    else match (norm_base r (fst v), snd v) with
-         | (BBranch b, []) =>                         (* dirty branch: `db/branch` is the branch's working set *)
-           match branch_working r b with
-           | Some w => match assoc t (d_schema w) with
-                       | Some cols => ans_eqb a (ARows cols (rows_of t (d_data w)))
-                       | None => is_error a
-                       end
-           | None => is_error a
-           end
-         | _ => match a with ARows _ _ | AHist _ _ => want_commit r v t a | _ => true end   (* refusing is fine; rows must be the right ones *)
-         end
-     if revdb_denotes r v then want_commit r v t a
-    else match (norm_base r (fst v), snd v) with
-         | (BBranch b, []) =>                         (* dirty branch: `db/branch` is the branch's working set *)
-           match branch_working r b with
-           | Some w => match assoc t (d_schema w) with
-                       | Some cols => ans_eqb a (ARows cols (rows_of t (d_data w)))
-                       | None => is_error a
-                       end
-           | None => is_error a
-           end
-         | _ => match a with ARows _ _ | AHist _ _ => want_commit r v t a | _ => true end   (* refusing is fine; rows must be the right ones *)
-         end
-h    if revdb_denotes r v then want_commit r v t a
-    else match (norm_base r (fst v), snd v) with
-         | (BBranch b, []) =>                         (* dirty branch: `db/branch` is the branch's working set *)
-           match branch_working r b with
-           | Some w => match assoc t (d_schema w) with
-                       | Some cols => ans_eqb a (ARows cols (rows_of t (d_data w)))
-                       | None => is_error a
-                       end
-           | None => is_error a
-           end
-         | _ => match a with ARows _ _ | AHist _ _ => want_commit r v t a | _ => true end   (* refusing is fine; rows must be the right ones *)
-         end
-i    if revdb_denotes r v then want_commit r v t a
-    else match (norm_base r (fst v), snd v) with
-         | (BBranch b, []) =>                         (* dirty branch: `db/branch` is the branch's working set *)
-           match branch_working r b with
-           | Some w => match assoc t (d_schema w) with
-                       | Some cols => ans_eqb a (ARows cols (rows_of t (d_data w)))
-                       | None => is_error a
-                       end
-           | None => is_error a
-           end
-         | _ => match a with ARows _ _ | AHist _ _ => want_commit r v t a | _ => true end   (* refusing is fine; rows must be the right ones *)
-         end
-s    if revdb_denotes r v then want_commit r v t a
-    else match (norm_base r (fst v), snd v) with
-         | (BBranch b, []) =>                         (* dirty branch: `db/branch` is the branch's working set *)
-           match branch_working r b with
-           | Some w => match assoc t (d_schema w) with
-                       | Some cols => ans_eqb a (ARows cols (rows_of t (d_data w)))
-                       | None => is_error a
-                       end
-           | None => is_error a
-           end
-         | _ => match a with ARows _ _ | AHist _ _ => want_commit r v t a | _ => true end   (* refusing is fine; rows must be the right ones *)
-         end
-t    if revdb_denotes r v then want_commit r v t a
-    else match (norm_base r (fst v), snd v) with
-         | (BBranch b, []) =>                         (* dirty branch: `db/branch` is the branch's working set *)
-           match branch_working r b with
-           | Some w => match assoc t (d_schema w) with
-                       | Some cols => ans_eqb a (ARows cols (rows_of t (d_data w)))
-                       | None => is_error a
-                       end
-           | None => is_error a
-           end
-         | _ => match a with ARows _ _ | AHist _ _ => want_commit r v t a | _ => true end   (* refusing is fine; rows must be the right ones *)
-         end
-o    if revdb_denotes r v then want_commit r v t a
-    else match (norm_base r (fst v), snd v) with
-         | (BBranch b, []) =>                         (* dirty branch: `db/branch` is the branch's working set *)
-           match branch_working r b with
-           | Some w => match assoc t (d_schema w) with
-                       | Some cols => ans_eqb a (ARows cols (rows_of t (d_data w)))
-                       | None => is_error a
-                       end
-           | None => is_error a
-           end
-         | _ => match a with ARows _ _ | AHist _ _ => want_commit r v t a | _ => true end   (* refusing is fine; rows must be the right ones *)
-         end
-r    if revdb_denotes r v then want_commit r v t a
-    else match (norm_base r (fst v), snd v) with
-         | (BBranch b, []) =>                         (* dirty branch: `db/branch` is the branch's working set *)
-           match branch_working r b with
-           | Some w => match assoc t (d_schema w) with
-                       | Some cols => ans_eqb a (ARows cols (rows_of t (d_data w)))
-                       | None => is_error a
-                       end
-           | None => is_error a
-           end
-         | _ => match a with ARows _ _ | AHist _ _ => want_commit r v t a | _ => true end   (* refusing is fine; rows must be the right ones *)
-         end
-y    if revdb_denotes r v then want_commit r v t a
-    else match (norm_base r (fst v), snd v) with
-         | (BBranch b, []) =>                         (* dirty branch: `db/branch` is the branch's working set *)
-           match branch_working r b with
-           | Some w => match assoc t (d_schema w) with
-                       | Some cols => ans_eqb a (ARows cols (rows_of t (d_data w)))
-                       | None => is_error a
-                       end
-           | None => is_error a
-           end
-         | _ => match a with ARows _ _ | AHist _ _ => want_commit r v t a | _ => true end   (* refusing is fine; rows must be the right ones *)
-         end
-     if revdb_denotes r v then want_commit r v t a
-    else match (norm_base r (fst v), snd v) with
-         | (BBranch b, []) =>                         (* dirty branch: `db/branch` is the branch's working set *)
-           match branch_working r b with
-           | Some w => match assoc t (d_schema w) with
-                       | Some cols => ans_eqb a (ARows cols (rows_of t (d_data w)))
-                       | None => is_error a
-                       end
-           | None => is_error a
-           end
-         | _ => match a with ARows _ _ | AHist _ _ => want_commit r v t a | _ => true end   (* refusing is fine; rows must be the right ones *)
-         end
-m    if revdb_denotes r v then want_commit r v t a
-    else match (norm_base r (fst v), snd v) with
-         | (BBranch b, []) =>                         (* dirty branch: `db/branch` is the branch's working set *)
-           match branch_working r b with
-           | Some w => match assoc t (d_schema w) with
-                       | Some cols => ans_eqb a (ARows cols (rows_of t (d_data w)))
-                       | None => is_error a
-                       end
-           | None => is_error a
-           end
-         | _ => match a with ARows _ _ | AHist _ _ => want_commit r v t a | _ => true end   (* refusing is fine; rows must be the right ones *)
-         end
-u    if revdb_denotes r v then want_commit r v t a
-    else match (norm_base r (fst v), snd v) with
-         | (BBranch b, []) =>                         (* dirty branch: `db/branch` is the branch's working set *)
-           match branch_working r b with
-           | Some w => match assoc t (d_schema w) with
-                       | Some cols => ans_eqb a (ARows cols (rows_of t (d_data w)))
-                       | None => is_error a
-                       end
-           | None => is_error a
-           end
-         | _ => match a with ARows _ _ | AHist _ _ => want_commit r v t a | _ => true end   (* refusing is fine; rows must be the right ones *)
-         end
-s    if revdb_denotes r v then want_commit r v t a
-    else match (norm_base r (fst v), snd v) with
-         | (BBranch b, []) =>                         (* dirty branch: `db/branch` is the branch's working set *)
-           match branch_working r b with
-           | Some w => match assoc t (d_schema w) with
-                       | Some cols => ans_eqb a (ARows cols (rows_of t (d_data w)))
-                       | None => is_error a
-                       end
-           | None => is_error a
-           end
-         | _ => match a with ARows _ _ | AHist _ _ => want_commit r v t a | _ => true end   (* refusing is fine; rows must be the right ones *)
-         end
-t    if revdb_denotes r v then want_commit r v t a
-    else match (norm_base r (fst v), snd v) with
-         | (BBranch b, []) =>                         (* dirty branch: `db/branch` is the branch's working set *)
-           match branch_working r b with
-           | Some w => match assoc t (d_schema w) with
-                       | Some cols => ans_eqb a (ARows cols (rows_of t (d_data w)))
-                       | None => is_error a
-                       end
-           | None => is_error a
-           end
-         | _ => match a with ARows _ _ | AHist _ _ => want_commit r v t a | _ => true end   (* refusing is fine; rows must be the right ones *)
-         end
-     if revdb_denotes r v then want_commit r v t a
-    else match (norm_base r (fst v), snd v) with
-         | (BBranch b, []) =>                         (* dirty branch: `db/branch` is the branch's working set *)
-           match branch_working r b with
-           | Some w => match assoc t (d_schema w) with
-                       | Some cols => ans_eqb a (ARows cols (rows_of t (d_data w)))
-                       | None => is_error a
-                       end
-           | None => is_error a
-           end
-         | _ => match a with ARows _ _ | AHist _ _ => want_commit r v t a | _ => true end   (* refusing is fine; rows must be the right ones *)
-         end
-b    if revdb_denotes r v then want_commit r v t a
-    else match (norm_base r (fst v), snd v) with
-         | (BBranch b, []) =>                         (* dirty branch: `db/branch` is the branch's working set *)
-           match branch_working r b with
-           | Some w => match assoc t (d_schema w) with
-                       | Some cols => ans_eqb a (ARows cols (rows_of t (d_data w)))
-                       | None => is_error a
-                       end
-           | None => is_error a
-           end
-         | _ => match a with ARows _ _ | AHist _ _ => want_commit r v t a | _ => true end   (* refusing is fine; rows must be the right ones *)
-         end
-e    if revdb_denotes r v then want_commit r v t a
-    else match (norm_base r (fst v), snd v) with
-         | (BBranch b, []) =>                         (* dirty branch: `db/branch` is the branch's working set *)
-           match branch_working r b with
-           | Some w => match assoc t (d_schema w) with
-                       | Some cols => ans_eqb a (ARows cols (rows_of t (d_data w)))
-                       | None => is_error a
-                       end
-           | None => is_error a
-           end
-         | _ => match a with ARows _ _ | AHist _ _ => want_commit r v t a | _ => true end   (* refusing is fine; rows must be the right ones *)
-         end
-     if revdb_denotes r v then want_commit r v t a
-    else match (norm_base r (fst v), snd v) with
-         | (BBranch b, []) =>                         (* dirty branch: `db/branch` is the branch's working set *)
-           match branch_working r b with
-           | Some w => match assoc t (d_schema w) with
-                       | Some cols => ans_eqb a (ARows cols (rows_of t (d_data w)))
-                       | None => is_error a
-                       end
-           | None => is_error a
-           end
-         | _ => match a with ARows _ _ | AHist _ _ => want_commit r v t a | _ => true end   (* refusing is fine; rows must be the right ones *)
-         end
-w    if revdb_denotes r v then want_commit r v t a
-    else match (norm_base r (fst v), snd v) with
-         | (BBranch b, []) =>                         (* dirty branch: `db/branch` is the branch's working set *)
-           match branch_working r b with
-           | Some w => match assoc t (d_schema w) with
-                       | Some cols => ans_eqb a (ARows cols (rows_of t (d_data w)))
-                       | None => is_error a
-                       end
-           | None => is_error a
-           end
-         | _ => match a with ARows _ _ | AHist _ _ => want_commit r v t a | _ => true end   (* refusing is fine; rows must be the right ones *)
-         end
-e    if revdb_denotes r v then want_commit r v t a
-    else match (norm_base r (fst v), snd v) with
-         | (BBranch b, []) =>                         (* dirty branch: `db/branch` is the branch's working set *)
-           match branch_working r b with
-           | Some w => match assoc t (d_schema w) with
-                       | Some cols => ans_eqb a (ARows cols (rows_of t (d_data w)))
-                       | None => is_error a
-                       end
-           | None => is_error a
-           end
-         | _ => match a with ARows _ _ | AHist _ _ => want_commit r v t a | _ => true end   (* refusing is fine; rows must be the right ones *)
-         end
-l    if revdb_denotes r v then want_commit r v t a
-    else match (norm_base r (fst v), snd v) with
-         | (BBranch b, []) =>                         (* dirty branch: `db/branch` is the branch's working set *)
-           match branch_working r b with
-           | Some w => match assoc t (d_schema w) with
-                       | Some cols => ans_eqb a (ARows cols (rows_of t (d_data w)))
-                       | None => is_error a
-                       end
-           | None => is_error a
-           end
-         | _ => match a with ARows _ _ | AHist _ _ => want_commit r v t a | _ => true end   (* refusing is fine; rows must be the right ones *)
-         end
-l    if revdb_denotes r v then want_commit r v t a
-    else match (norm_base r (fst v), snd v) with
-         | (BBranch b, []) =>                         (* dirty branch: `db/branch` is the branch's working set *)
-           match branch_working r b with
-           | Some w => match assoc t (d_schema w) with
-                       | Some cols => ans_eqb a (ARows cols (rows_of t (d_data w)))
-                       | None => is_error a
-                       end
-           | None => is_error a
-           end
-         | _ => match a with ARows _ _ | AHist _ _ => want_commit r v t a | _ => true end   (* refusing is fine; rows must be the right ones *)
-         end
-     if revdb_denotes r v then want_commit r v t a
-    else match (norm_base r (fst v), snd v) with
-         | (BBranch b, []) =>                         (* dirty branch: `db/branch` is the branch's working set *)
-           match branch_working r b with
-           | Some w => match assoc t (d_schema w) with
-                       | Some cols => ans_eqb a (ARows cols (rows_of t (d_data w)))
-                       | None => is_error a
-                       end
-           | None => is_error a
-           end
-         | _ => match a with ARows _ _ | AHist _ _ => want_commit r v t a | _ => true end   (* refusing is fine; rows must be the right ones *)
-         end
-f    if revdb_denotes r v then want_commit r v t a
-    else match (norm_base r (fst v), snd v) with
-         | (BBranch b, []) =>                         (* dirty branch: `db/branch` is the branch's working set *)
-           match branch_working r b with
-           | Some w => match assoc t (d_schema w) with
-                       | Some cols => ans_eqb a (ARows cols (rows_of t (d_data w)))
-                       | None => is_error a
-                       end
-           | None => is_error a
-           end
-         | _ => match a with ARows _ _ | AHist _ _ => want_commit r v t a | _ => true end   (* refusing is fine; rows must be the right ones *)
-         end
-o    if revdb_denotes r v then want_commit r v t a
-    else match (norm_base r (fst v), snd v) with
-         | (BBranch b, []) =>                         (* dirty branch: `db/branch` is the branch's working set *)
-           match branch_working r b with
-           | Some w => match assoc t (d_schema w) with
-                       | Some cols => ans_eqb a (ARows cols (rows_of t (d_data w)))
-                       | None => is_error a
-                       end
-           | None => is_error a
-           end
-         | _ => match a with ARows _ _ | AHist _ _ => want_commit r v t a | _ => true end   (* refusing is fine; rows must be the right ones *)
-         end
-r    if revdb_denotes r v then want_commit r v t a
-    else match (norm_base r (fst v), snd v) with
-         | (BBranch b, []) =>                         (* dirty branch: `db/branch` is the branch's working set *)
-           match branch_working r b with
-           | Some w => match assoc t (d_schema w) with
-                       | Some cols => ans_eqb a (ARows cols (rows_of t (d_data w)))
-                       | None => is_error a
-                       end
-           | None => is_error a
-           end
-         | _ => match a with ARows _ _ | AHist _ _ => want_commit r v t a | _ => true end   (* refusing is fine; rows must be the right ones *)
-         end
-m    if revdb_denotes r v then want_commit r v t a
-    else match (norm_base r (fst v), snd v) with
-         | (BBranch b, []) =>                         (* dirty branch: `db/branch` is the branch's working set *)
-           match branch_working r b with
-           | Some w => match assoc t (d_schema w) with
-                       | Some cols => ans_eqb a (ARows cols (rows_of t (d_data w)))
-                       | None => is_error a
-                       end
-           | None => is_error a
-           end
-         | _ => match a with ARows _ _ | AHist _ _ => want_commit r v t a | _ => true end   (* refusing is fine; rows must be the right ones *)
-         end
-e    if revdb_denotes r v then want_commit r v t a
-    else match (norm_base r (fst v), snd v) with
-         | (BBranch b, []) =>                         (* dirty branch: `db/branch` is the branch's working set *)
-           match branch_working r b with
-           | Some w => match assoc t (d_schema w) with
-                       | Some cols => ans_eqb a (ARows cols (rows_of t (d_data w)))
-                       | None => is_error a
-                       end
-           | None => is_error a
-           end
-         | _ => match a with ARows _ _ | AHist _ _ => want_commit r v t a | _ => true end   (* refusing is fine; rows must be the right ones *)
-         end
-d    if revdb_denotes r v then want_commit r v t a
-    else match (norm_base r (fst v), snd v) with
-         | (BBranch b, []) =>                         (* dirty branch: `db/branch` is the branch's working set *)
-           match branch_working r b with
-           | Some w => match assoc t (d_schema w) with
-                       | Some cols => ans_eqb a (ARows cols (rows_of t (d_data w)))
-                       | None => is_error a
-                       end
-           | None => is_error a
-           end
-         | _ => match a with ARows _ _ | AHist _ _ => want_commit r v t a | _ => true end   (* refusing is fine; rows must be the right ones *)
-         end
-     if revdb_denotes r v then want_commit r v t a
-    else match (norm_base r (fst v), snd v) with
-         | (BBranch b, []) =>                         (* dirty branch: `db/branch` is the branch's working set *)
-           match branch_working r b with
-           | Some w => match assoc t (d_schema w) with
-                       | Some cols => ans_eqb a (ARows cols (rows_of t (d_data w)))
-                       | None => is_error a
-                       end
-           | None => is_error a
-           end
-         | _ => match a with ARows _ _ | AHist _ _ => want_commit r v t a | _ => true end   (* refusing is fine; rows must be the right ones *)
-         end
-(    if revdb_denotes r v then want_commit r v t a
-    else match (norm_base r (fst v), snd v) with
-         | (BBranch b, []) =>                         (* dirty branch: `db/branch` is the branch's working set *)
-           match branch_working r b with
-           | Some w => match assoc t (d_schema w) with
-                       | Some cols => ans_eqb a (ARows cols (rows_of t (d_data w)))
-                       | None => is_error a
-                       end
-           | None => is_error a
-           end
-         | _ => match a with ARows _ _ | AHist _ _ => want_commit r v t a | _ => true end   (* refusing is fine; rows must be the right ones *)
-         end
-p    if revdb_denotes r v then want_commit r v t a
-    else match (norm_base r (fst v), snd v) with
-         | (BBranch b, []) =>                         (* dirty branch: `db/branch` is the branch's working set *)
-           match branch_working r b with
-           | Some w => match assoc t (d_schema w) with
-                       | Some cols => ans_eqb a (ARows cols (rows_of t (d_data w)))
-                       | None => is_error a
-                       end
-           | None => is_error a
-           end
-         | _ => match a with ARows _ _ | AHist _ _ => want_commit r v t a | _ => true end   (* refusing is fine; rows must be the right ones *)
-         end
-a    if revdb_denotes r v then want_commit r v t a
-    else match (norm_base r (fst v), snd v) with
-         | (BBranch b, []) =>                         (* dirty branch: `db/branch` is the branch's working set *)
-           match branch_working r b with
-           | Some w => match assoc t (d_schema w) with
-                       | Some cols => ans_eqb a (ARows cols (rows_of t (d_data w)))
-                       | None => is_error a
-                       end
-           | None => is_error a
-           end
-         | _ => match a with ARows _ _ | AHist _ _ => want_commit r v t a | _ => true end   (* refusing is fine; rows must be the right ones *)
-         end
-r    if revdb_denotes r v then want_commit r v t a
-    else match (norm_base r (fst v), snd v) with
-         | (BBranch b, []) =>                         (* dirty branch: `db/branch` is the branch's working set *)
-           match branch_working r b with
-           | Some w => match assoc t (d_schema w) with
-                       | Some cols => ans_eqb a (ARows cols (rows_of t (d_data w)))
-                       | None => is_error a
-                       end
-           | None => is_error a
-           end
-         | _ => match a with ARows _ _ | AHist _ _ => want_commit r v t a | _ => true end   (* refusing is fine; rows must be the right ones *)
-         end
-e    if revdb_denotes r v then want_commit r v t a
-    else match (norm_base r (fst v), snd v) with
-         | (BBranch b, []) =>                         (* dirty branch: `db/branch` is the branch's working set *)
-           match branch_working r b with
-           | Some w => match assoc t (d_schema w) with
-                       | Some cols => ans_eqb a (ARows cols (rows_of t (d_data w)))
-                       | None => is_error a
-                       end
-           | None => is_error a
-           end
-         | _ => match a with ARows _ _ | AHist _ _ => want_commit r v t a | _ => true end   (* refusing is fine; rows must be the right ones *)
-         end
-n    if revdb_denotes r v then want_commit r v t a
-    else match (norm_base r (fst v), snd v) with
-         | (BBranch b, []) =>                         (* dirty branch: `db/branch` is the branch's working set *)
-           match branch_working r b with
-           | Some w => match assoc t (d_schema w) with
-                       | Some cols => ans_eqb a (ARows cols (rows_of t (d_data w)))
-                       | None => is_error a
-                       end
-           | None => is_error a
-           end
-         | _ => match a with ARows _ _ | AHist _ _ => want_commit r v t a | _ => true end   (* refusing is fine; rows must be the right ones *)
-         end
-t    if revdb_denotes r v then want_commit r v t a
-    else match (norm_base r (fst v), snd v) with
-         | (BBranch b, []) =>                         (* dirty branch: `db/branch` is the branch's working set *)
-           match branch_working r b with
-           | Some w => match assoc t (d_schema w) with
-                       | Some cols => ans_eqb a (ARows cols (rows_of t (d_data w)))
-                       | None => is_error a
-                       end
-           | None => is_error a
-           end
-         | _ => match a with ARows _ _ | AHist _ _ => want_commit r v t a | _ => true end   (* refusing is fine; rows must be the right ones *)
-         end
-s    if revdb_denotes r v then want_commit r v t a
-    else match (norm_base r (fst v), snd v) with
-         | (BBranch b, []) =>                         (* dirty branch: `db/branch` is the branch's working set *)
-           match branch_working r b with
-           | Some w => match assoc t (d_schema w) with
-                       | Some cols => ans_eqb a (ARows cols (rows_of t (d_data w)))
-                       | None => is_error a
-                       end
-           | None => is_error a
-           end
-         | _ => match a with ARows _ _ | AHist _ _ => want_commit r v t a | _ => true end   (* refusing is fine; rows must be the right ones *)
-         end
-     if revdb_denotes r v then want_commit r v t a
-    else match (norm_base r (fst v), snd v) with
-         | (BBranch b, []) =>                         (* dirty branch: `db/branch` is the branch's working set *)
-           match branch_working r b with
-           | Some w => match assoc t (d_schema w) with
-                       | Some cols => ans_eqb a (ARows cols (rows_of t (d_data w)))
-                       | None => is_error a
-                       end
-           | None => is_error a
-           end
-         | _ => match a with ARows _ _ | AHist _ _ => want_commit r v t a | _ => true end   (* refusing is fine; rows must be the right ones *)
-         end
-r    if revdb_denotes r v then want_commit r v t a
-    else match (norm_base r (fst v), snd v) with
-         | (BBranch b, []) =>                         (* dirty branch: `db/branch` is the branch's working set *)
-           match branch_working r b with
-           | Some w => match assoc t (d_schema w) with
-                       | Some cols => ans_eqb a (ARows cols (rows_of t (d_data w)))
-                       | None => is_error a
-                       end
-           | None => is_error a
-           end
-         | _ => match a with ARows _ _ | AHist _ _ => want_commit r v t a | _ => true end   (* refusing is fine; rows must be the right ones *)
-         end
-e    if revdb_denotes r v then want_commit r v t a
-    else match (norm_base r (fst v), snd v) with
-         | (BBranch b, []) =>                         (* dirty branch: `db/branch` is the branch's working set *)
-           match branch_working r b with
-           | Some w => match assoc t (d_schema w) with
-                       | Some cols => ans_eqb a (ARows cols (rows_of t (d_data w)))
-                       | None => is_error a
-                       end
-           | None => is_error a
-           end
-         | _ => match a with ARows _ _ | AHist _ _ => want_commit r v t a | _ => true end   (* refusing is fine; rows must be the right ones *)
-         end
-c    if revdb_denotes r v then want_commit r v t a
-    else match (norm_base r (fst v), snd v) with
-         | (BBranch b, []) =>                         (* dirty branch: `db/branch` is the branch's working set *)
-           match branch_working r b with
-           | Some w => match assoc t (d_schema w) with
-                       | Some cols => ans_eqb a (ARows cols (rows_of t (d_data w)))
-                       | None => is_error a
-                       end
-           | None => is_error a
-           end
-         | _ => match a with ARows _ _ | AHist _ _ => want_commit r v t a | _ => true end   (* refusing is fine; rows must be the right ones *)
-         end
-o    if revdb_denotes r v then want_commit r v t a
-    else match (norm_base r (fst v), snd v) with
-         | (BBranch b, []) =>                         (* dirty branch: `db/branch` is the branch's working set *)
-           match branch_working r b with
-           | Some w => match assoc t (d_schema w) with
-                       | Some cols => ans_eqb a (ARows cols (rows_of t (d_data w)))
-                       | None => is_error a
-                       end
-           | None => is_error a
-           end
-         | _ => match a with ARows _ _ | AHist _ _ => want_commit r v t a | _ => true end   (* refusing is fine; rows must be the right ones *)
-         end
-r    if revdb_denotes r v then want_commit r v t a
-    else match (norm_base r (fst v), snd v) with
-         | (BBranch b, []) =>                         (* dirty branch: `db/branch` is the branch's working set *)
-           match branch_working r b with
-           | Some w => match assoc t (d_schema w) with
-                       | Some cols => ans_eqb a (ARows cols (rows_of t (d_data w)))
-                       | None => is_error a
-                       end
-           | None => is_error a
-           end
-         | _ => match a with ARows _ _ | AHist _ _ => want_commit r v t a | _ => true end   (* refusing is fine; rows must be the right ones *)
-         end
-d    if revdb_denotes r v then want_commit r v t a
-    else match (norm_base r (fst v), snd v) with
-         | (BBranch b, []) =>                         (* dirty branch: `db/branch` is the branch's working set *)
-           match branch_working r b with
-           | Some w => match assoc t (d_schema w) with
-                       | Some cols => ans_eqb a (ARows cols (rows_of t (d_data w)))
-                       | None => is_error a
-                       end
-           | None => is_error a
-           end
-         | _ => match a with ARows _ _ | AHist _ _ => want_commit r v t a | _ => true end   (* refusing is fine; rows must be the right ones *)
-         end
-e    if revdb_denotes r v then want_commit r v t a
-    else match (norm_base r (fst v), snd v) with
-         | (BBranch b, []) =>                         (* dirty branch: `db/branch` is the branch's working set *)
-           match branch_working r b with
-           | Some w => match assoc t (d_schema w) with
-                       | Some cols => ans_eqb a (ARows cols (rows_of t (d_data w)))
-                       | None => is_error a
-                       end
-           | None => is_error a
-           end
-         | _ => match a with ARows _ _ | AHist _ _ => want_commit r v t a | _ => true end   (* refusing is fine; rows must be the right ones *)
-         end
-d    if revdb_denotes r v then want_commit r v t a
-    else match (norm_base r (fst v), snd v) with
-         | (BBranch b, []) =>                         (* dirty branch: `db/branch` is the branch's working set *)
-           match branch_working r b with
-           | Some w => match assoc t (d_schema w) with
-                       | Some cols => ans_eqb a (ARows cols (rows_of t (d_data w)))
-                       | None => is_error a
-                       end
-           | None => is_error a
-           end
-         | _ => match a with ARows _ _ | AHist _ _ => want_commit r v t a | _ => true end   (* refusing is fine; rows must be the right ones *)
-         end
-     if revdb_denotes r v then want_commit r v t a
-    else match (norm_base r (fst v), snd v) with
-         | (BBranch b, []) =>                         (* dirty branch: `db/branch` is the branch's working set *)
-           match branch_working r b with
-           | Some w => match assoc t (d_schema w) with
-                       | Some cols => ans_eqb a (ARows cols (rows_of t (d_data w)))
-                       | None => is_error a
-                       end
-           | None => is_error a
-           end
-         | _ => match a with ARows _ _ | AHist _ _ => want_commit r v t a | _ => true end   (* refusing is fine; rows must be the right ones *)
-         end
-b    if revdb_denotes r v then want_commit r v t a
-    else match (norm_base r (fst v), snd v) with
-         | (BBranch b, []) =>                         (* dirty branch: `db/branch` is the branch's working set *)
-           match branch_working r b with
-           | Some w => match assoc t (d_schema w) with
-                       | Some cols => ans_eqb a (ARows cols (rows_of t (d_data w)))
-                       | None => is_error a
-                       end
-           | None => is_error a
-           end
-         | _ => match a with ARows _ _ | AHist _ _ => want_commit r v t a | _ => true end   (* refusing is fine; rows must be the right ones *)
-         end
-e    if revdb_denotes r v then want_commit r v t a
-    else match (norm_base r (fst v), snd v) with
-         | (BBranch b, []) =>                         (* dirty branch: `db/branch` is the branch's working set *)
-           match branch_working r b with
-           | Some w => match assoc t (d_schema w) with
-                       | Some cols => ans_eqb a (ARows cols (rows_of t (d_data w)))
-                       | None => is_error a
-                       end
-           | None => is_error a
-           end
-         | _ => match a with ARows _ _ | AHist _ _ => want_commit r v t a | _ => true end   (* refusing is fine; rows must be the right ones *)
-         end
-f    if revdb_denotes r v then want_commit r v t a
-    else match (norm_base r (fst v), snd v) with
-         | (BBranch b, []) =>                         (* dirty branch: `db/branch` is the branch's working set *)
-           match branch_working r b with
-           | Some w => match assoc t (d_schema w) with
-                       | Some cols => ans_eqb a (ARows cols (rows_of t (d_data w)))
-                       | None => is_error a
-                       end
-           | None => is_error a
-           end
-         | _ => match a with ARows _ _ | AHist _ _ => want_commit r v t a | _ => true end   (* refusing is fine; rows must be the right ones *)
-         end
-o    if revdb_denotes r v then want_commit r v t a
-    else match (norm_base r (fst v), snd v) with
-         | (BBranch b, []) =>                         (* dirty branch: `db/branch` is the branch's working set *)
-           match branch_working r b with
-           | Some w => match assoc t (d_schema w) with
-                       | Some cols => ans_eqb a (ARows cols (rows_of t (d_data w)))
-                       | None => is_error a
-                       end
-           | None => is_error a
-           end
-         | _ => match a with ARows _ _ | AHist _ _ => want_commit r v t a | _ => true end   (* refusing is fine; rows must be the right ones *)
-         end
-r    if revdb_denotes r v then want_commit r v t a
-    else match (norm_base r (fst v), snd v) with
-         | (BBranch b, []) =>                         (* dirty branch: `db/branch` is the branch's working set *)
-           match branch_working r b with
-           | Some w => match assoc t (d_schema w) with
-                       | Some cols => ans_eqb a (ARows cols (rows_of t (d_data w)))
-                       | None => is_error a
-                       end
-           | None => is_error a
-           end
-         | _ => match a with ARows _ _ | AHist _ _ => want_commit r v t a | _ => true end   (* refusing is fine; rows must be the right ones *)
-         end
-e    if revdb_denotes r v then want_commit r v t a
-    else match (norm_base r (fst v), snd v) with
-         | (BBranch b, []) =>                         (* dirty branch: `db/branch` is the branch's working set *)
-           match branch_working r b with
-           | Some w => match assoc t (d_schema w) with
-                       | Some cols => ans_eqb a (ARows cols (rows_of t (d_data w)))
-                       | None => is_error a
-                       end
-           | None => is_error a
-           end
-         | _ => match a with ARows _ _ | AHist _ _ => want_commit r v t a | _ => true end   (* refusing is fine; rows must be the right ones *)
-         end
-     if revdb_denotes r v then want_commit r v t a
-    else match (norm_base r (fst v), snd v) with
-         | (BBranch b, []) =>                         (* dirty branch: `db/branch` is the branch's working set *)
-           match branch_working r b with
-           | Some w => match assoc t (d_schema w) with
-                       | Some cols => ans_eqb a (ARows cols (rows_of t (d_data w)))
-                       | None => is_error a
-                       end
-           | None => is_error a
-           end
-         | _ => match a with ARows _ _ | AHist _ _ => want_commit r v t a | _ => true end   (* refusing is fine; rows must be the right ones *)
-         end
-c    if revdb_denotes r v then want_commit r v t a
-    else match (norm_base r (fst v), snd v) with
-         | (BBranch b, []) =>                         (* dirty branch: `db/branch` is the branch's working set *)
-           match branch_working r b with
-           | Some w => match assoc t (d_schema w) with
-                       | Some cols => ans_eqb a (ARows cols (rows_of t (d_data w)))
-                       | None => is_error a
-                       end
-           | None => is_error a
-           end
-         | _ => match a with ARows _ _ | AHist _ _ => want_commit r v t a | _ => true end   (* refusing is fine; rows must be the right ones *)
-         end
-h    if revdb_denotes r v then want_commit r v t a
-    else match (norm_base r (fst v), snd v) with
-         | (BBranch b, []) =>                         (* dirty branch: `db/branch` is the branch's working set *)
-           match branch_working r b with
-           | Some w => match assoc t (d_schema w) with
-                       | Some cols => ans_eqb a (ARows cols (rows_of t (d_data w)))
-                       | None => is_error a
-                       end
-           | None => is_error a
-           end
-         | _ => match a with ARows _ _ | AHist _ _ => want_commit r v t a | _ => true end   (* refusing is fine; rows must be the right ones *)
-         end
-i    if revdb_denotes r v then want_commit r v t a
-    else match (norm_base r (fst v), snd v) with
-         | (BBranch b, []) =>                         (* dirty branch: `db/branch` is the branch's working set *)
-           match branch_working r b with
-           | Some w => match assoc t (d_schema w) with
-                       | Some cols => ans_eqb a (ARows cols (rows_of t (d_data w)))
-                       | None => is_error a
-                       end
-           | None => is_error a
-           end
-         | _ => match a with ARows _ _ | AHist _ _ => want_commit r v t a | _ => true end   (* refusing is fine; rows must be the right ones *)
-         end
-l    if revdb_denotes r v then want_commit r v t a
-    else match (norm_base r (fst v), snd v) with
-         | (BBranch b, []) =>                         (* dirty branch: `db/branch` is the branch's working set *)
-           match branch_working r b with
-           | Some w => match assoc t (d_schema w) with
-                       | Some cols => ans_eqb a (ARows cols (rows_of t (d_data w)))
-                       | None => is_error a
-                       end
-           | None => is_error a
-           end
-         | _ => match a with ARows _ _ | AHist _ _ => want_commit r v t a | _ => true end   (* refusing is fine; rows must be the right ones *)
-         end
-d    if revdb_denotes r v then want_commit r v t a
-    else match (norm_base r (fst v), snd v) with
-         | (BBranch b, []) =>                         (* dirty branch: `db/branch` is the branch's working set *)
-           match branch_working r b with
-           | Some w => match assoc t (d_schema w) with
-                       | Some cols => ans_eqb a (ARows cols (rows_of t (d_data w)))
-                       | None => is_error a
-                       end
-           | None => is_error a
-           end
-         | _ => match a with ARows _ _ | AHist _ _ => want_commit r v t a | _ => true end   (* refusing is fine; rows must be the right ones *)
-         end
-r    if revdb_denotes r v then want_commit r v t a
-    else match (norm_base r (fst v), snd v) with
-         | (BBranch b, []) =>                         (* dirty branch: `db/branch` is the branch's working set *)
-           match branch_working r b with
-           | Some w => match assoc t (d_schema w) with
-                       | Some cols => ans_eqb a (ARows cols (rows_of t (d_data w)))
-                       | None => is_error a
-                       end
-           | None => is_error a
-           end
-         | _ => match a with ARows _ _ | AHist _ _ => want_commit r v t a | _ => true end   (* refusing is fine; rows must be the right ones *)
-         end
-e    if revdb_denotes r v then want_commit r v t a
-    else match (norm_base r (fst v), snd v) with
-         | (BBranch b, []) =>                         (* dirty branch: `db/branch` is the branch's working set *)
-           match branch_working r b with
-           | Some w => match assoc t (d_schema w) with
-                       | Some cols => ans_eqb a (ARows cols (rows_of t (d_data w)))
-                       | None => is_error a
-                       end
-           | None => is_error a
-           end
-         | _ => match a with ARows _ _ | AHist _ _ => want_commit r v t a | _ => true end   (* refusing is fine; rows must be the right ones *)
-         end
-n    if revdb_denotes r v then want_commit r v t a
-    else match (norm_base r (fst v), snd v) with
-         | (BBranch b, []) =>                         (* dirty branch: `db/branch` is the branch's working set *)
-           match branch_working r b with
-           | Some w => match assoc t (d_schema w) with
-                       | Some cols => ans_eqb a (ARows cols (rows_of t (d_data w)))
-                       | None => is_error a
-                       end
-           | None => is_error a
-           end
-         | _ => match a with ARows _ _ | AHist _ _ => want_commit r v t a | _ => true end   (* refusing is fine; rows must be the right ones *)
-         end
-)    if revdb_denotes r v then want_commit r v t a
-    else match (norm_base r (fst v), snd v) with
-         | (BBranch b, []) =>                         (* dirty branch: `db/branch` is the branch's working set *)
-           match branch_working r b with
-           | Some w => match assoc t (d_schema w) with
-                       | Some cols => ans_eqb a (ARows cols (rows_of t (d_data w)))
-                       | None => is_error a
-                       end
-           | None => is_error a
-           end
-         | _ => match a with ARows _ _ | AHist _ _ => want_commit r v t a | _ => true end   (* refusing is fine; rows must be the right ones *)
-         end
-     if revdb_denotes r v then want_commit r v t a
-    else match (norm_base r (fst v), snd v) with
-         | (BBranch b, []) =>                         (* dirty branch: `db/branch` is the branch's working set *)
-           match branch_working r b with
-           | Some w => match assoc t (d_schema w) with
-                       | Some cols => ans_eqb a (ARows cols (rows_of t (d_data w)))
-                       | None => is_error a
-                       end
-           | None => is_error a
-           end
-         | _ => match a with ARows _ _ | AHist _ _ => want_commit r v t a | _ => true end   (* refusing is fine; rows must be the right ones *)
-         end
-*    if revdb_denotes r v then want_commit r v t a
-    else match (norm_base r (fst v), snd v) with
-         | (BBranch b, []) =>                         (* dirty branch: `db/branch` is the branch's working set *)
-           match branch_working r b with
-           | Some w => match assoc t (d_schema w) with
-                       | Some cols => ans_eqb a (ARows cols (rows_of t (d_data w)))
-                       | None => is_error a
-                       end
-           | None => is_error a
-           end
-         | _ => match a with ARows _ _ | AHist _ _ => want_commit r v t a | _ => true end   (* refusing is fine; rows must be the right ones *)
-         end
-)    if revdb_denotes r v then want_commit r v t a
-    else match (norm_base r (fst v), snd v) with
-         | (BBranch b, []) =>                         (* dirty branch: `db/branch` is the branch's working set *)
-           match branch_working r b with
-           | Some w => match assoc t (d_schema w) with
-                       | Some cols => ans_eqb a (ARows cols (rows_of t (d_data w)))
-                       | None => is_error a
-                       end
-           | None => is_error a
-           end
-         | _ => match a with ARows _ _ | AHist _ _ => want_commit r v t a | _ => true end   (* refusing is fine; rows must be the right ones *)
-         end
-
-    if revdb_denotes r v then want_commit r v t a
-    else match (norm_base r (fst v), snd v) with
-         | (BBranch b, []) =>                         (* dirty branch: `db/branch` is the branch's working set *)
-           match branch_working r b with
-           | Some w => match assoc t (d_schema w) with
-                       | Some cols => ans_eqb a (ARows cols (rows_of t (d_data w)))
-                       | None => is_error a
-                       end
-           | None => is_error a
-           end
-         | _ => match a with ARows _ _ | AHist _ _ => want_commit r v t a | _ => true end   (* refusing is fine; rows must be the right ones *)
-         end
-D    if revdb_denotes r v then want_commit r v t a
-    else match (norm_base r (fst v), snd v) with
-         | (BBranch b, []) =>                         (* dirty branch: `db/branch` is the branch's working set *)
-           match branch_working r b with
-           | Some w => match assoc t (d_schema w) with
-                       | Some cols => ans_eqb a (ARows cols (rows_of t (d_data w)))
-                       | None => is_error a
-                       end
-           | None => is_error a
-           end
-         | _ => match a with ARows _ _ | AHist _ _ => want_commit r v t a | _ => true end   (* refusing is fine; rows must be the right ones *)
-         end
-e    if revdb_denotes r v then want_commit r v t a
-    else match (norm_base r (fst v), snd v) with
-         | (BBranch b, []) =>                         (* dirty branch: `db/branch` is the branch's working set *)
-           match branch_working r b with
-           | Some w => match assoc t (d_schema w) with
-                       | Some cols => ans_eqb a (ARows cols (rows_of t (d_data w)))
-                       | None => is_error a
-                       end
-           | None => is_error a
-           end
-         | _ => match a with ARows _ _ | AHist _ _ => want_commit r v t a | _ => true end   (* refusing is fine; rows must be the right ones *)
-         end
-f    if revdb_denotes r v then want_commit r v t a
-    else match (norm_base r (fst v), snd v) with
-         | (BBranch b, []) =>                         (* dirty branch: `db/branch` is the branch's working set *)
-           match branch_working r b with
-           | Some w => match assoc t (d_schema w) with
-                       | Some cols => ans_eqb a (ARows cols (rows_of t (d_data w)))
-                       | None => is_error a
-                       end
-           | None => is_error a
-           end
-         | _ => match a with ARows _ _ | AHist _ _ => want_commit r v t a | _ => true end   (* refusing is fine; rows must be the right ones *)
-         end
-i    if revdb_denotes r v then want_commit r v t a
-    else match (norm_base r (fst v), snd v) with
-         | (BBranch b, []) =>                         (* dirty branch: `db/branch` is the branch's working set *)
-           match branch_working r b with
-           | Some w => match assoc t (d_schema w) with
-                       | Some cols => ans_eqb a (ARows cols (rows_of t (d_data w)))
-                       | None => is_error a
-                       end
-           | None => is_error a
-           end
-         | _ => match a with ARows _ _ | AHist _ _ => want_commit r v t a | _ => true end   (* refusing is fine; rows must be the right ones *)
-         end
-n    if revdb_denotes r v then want_commit r v t a
-    else match (norm_base r (fst v), snd v) with
-         | (BBranch b, []) =>                         (* dirty branch: `db/branch` is the branch's working set *)
-           match branch_working r b with
-           | Some w => match assoc t (d_schema w) with
-                       | Some cols => ans_eqb a (ARows cols (rows_of t (d_data w)))
-                       | None => is_error a
-                       end
-           | None => is_error a
-           end
-         | _ => match a with ARows _ _ | AHist _ _ => want_commit r v t a | _ => true end   (* refusing is fine; rows must be the right ones *)
-         end
-i    if revdb_denotes r v then want_commit r v t a
-    else match (norm_base r (fst v), snd v) with
-         | (BBranch b, []) =>                         (* dirty branch: `db/branch` is the branch's working set *)
-           match branch_working r b with
-           | Some w => match assoc t (d_schema w) with
-                       | Some cols => ans_eqb a (ARows cols (rows_of t (d_data w)))
-                       | None => is_error a
-                       end
-           | None => is_error a
-           end
-         | _ => match a with ARows _ _ | AHist _ _ => want_commit r v t a | _ => true end   (* refusing is fine; rows must be the right ones *)
-         end
-t    if revdb_denotes r v then want_commit r v t a
-    else match (norm_base r (fst v), snd v) with
-         | (BBranch b, []) =>                         (* dirty branch: `db/branch` is the branch's working set *)
-           match branch_working r b with
-           | Some w => match assoc t (d_schema w) with
-                       | Some cols => ans_eqb a (ARows cols (rows_of t (d_data w)))
-                       | None => is_error a
-                       end
-           | None => is_error a
-           end
-         | _ => match a with ARows _ _ | AHist _ _ => want_commit r v t a | _ => true end   (* refusing is fine; rows must be the right ones *)
-         end
-i    if revdb_denotes r v then want_commit r v t a
-    else match (norm_base r (fst v), snd v) with
-         | (BBranch b, []) =>                         (* dirty branch: `db/branch` is the branch's working set *)
-           match branch_working r b with
-           | Some w => match assoc t (d_schema w) with
-                       | Some cols => ans_eqb a (ARows cols (rows_of t (d_data w)))
-                       | None => is_error a
-                       end
-           | None => is_error a
-           end
-         | _ => match a with ARows _ _ | AHist _ _ => want_commit r v t a | _ => true end   (* refusing is fine; rows must be the right ones *)
-         end
-o    if revdb_denotes r v then want_commit r v t a
-    else match (norm_base r (fst v), snd v) with
-         | (BBranch b, []) =>                         (* dirty branch: `db/branch` is the branch's working set *)
-           match branch_working r b with
-           | Some w => match assoc t (d_schema w) with
-                       | Some cols => ans_eqb a (ARows cols (rows_of t (d_data w)))
-                       | None => is_error a
-                       end
-           | None => is_error a
-           end
-         | _ => match a with ARows _ _ | AHist _ _ => want_commit r v t a | _ => true end   (* refusing is fine; rows must be the right ones *)
-         end
-n    if revdb_denotes r v then want_commit r v t a
-    else match (norm_base r (fst v), snd v) with
-         | (BBranch b, []) =>                         (* dirty branch: `db/branch` is the branch's working set *)
-           match branch_working r b with
-           | Some w => match assoc t (d_schema w) with
-                       | Some cols => ans_eqb a (ARows cols (rows_of t (d_data w)))
-                       | None => is_error a
-                       end
-           | None => is_error a
-           end
-         | _ => match a with ARows _ _ | AHist _ _ => want_commit r v t a | _ => true end   (* refusing is fine; rows must be the right ones *)
-         end
-     if revdb_denotes r v then want_commit r v t a
-    else match (norm_base r (fst v), snd v) with
-         | (BBranch b, []) =>                         (* dirty branch: `db/branch` is the branch's working set *)
-           match branch_working r b with
-           | Some w => match assoc t (d_schema w) with
-                       | Some cols => ans_eqb a (ARows cols (rows_of t (d_data w)))
-                       | None => is_error a
-                       end
-           | None => is_error a
-           end
-         | _ => match a with ARows _ _ | AHist _ _ => want_commit r v t a | _ => true end   (* refusing is fine; rows must be the right ones *)
-         end
-o    if revdb_denotes r v then want_commit r v t a
-    else match (norm_base r (fst v), snd v) with
-         | (BBranch b, []) =>                         (* dirty branch: `db/branch` is the branch's working set *)
-           match branch_working r b with
-           | Some w => match assoc t (d_schema w) with
-                       | Some cols => ans_eqb a (ARows cols (rows_of t (d_data w)))
-                       | None => is_error a
-                       end
-           | None => is_error a
-           end
-         | _ => match a with ARows _ _ | AHist _ _ => want_commit r v t a | _ => true end   (* refusing is fine; rows must be the right ones *)
-         end
-r    if revdb_denotes r v then want_commit r v t a
-    else match (norm_base r (fst v), snd v) with
-         | (BBranch b, []) =>                         (* dirty branch: `db/branch` is the branch's working set *)
-           match branch_working r b with
-           | Some w => match assoc t (d_schema w) with
-                       | Some cols => ans_eqb a (ARows cols (rows_of t (d_data w)))
-                       | None => is_error a
-                       end
-           | None => is_error a
-           end
-         | _ => match a with ARows _ _ | AHist _ _ => want_commit r v t a | _ => true end   (* refusing is fine; rows must be the right ones *)
-         end
-a    if revdb_denotes r v then want_commit r v t a
-    else match (norm_base r (fst v), snd v) with
-         | (BBranch b, []) =>                         (* dirty branch: `db/branch` is the branch's working set *)
-           match branch_working r b with
-           | Some w => match assoc t (d_schema w) with
-                       | Some cols => ans_eqb a (ARows cols (rows_of t (d_data w)))
-                       | None => is_error a
-                       end
-           | None => is_error a
-           end
-         | _ => match a with ARows _ _ | AHist _ _ => want_commit r v t a | _ => true end   (* refusing is fine; rows must be the right ones *)
-         end
-c    if revdb_denotes r v then want_commit r v t a
-    else match (norm_base r (fst v), snd v) with
-         | (BBranch b, []) =>                         (* dirty branch: `db/branch` is the branch's working set *)
-           match branch_working r b with
-           | Some w => match assoc t (d_schema w) with
-                       | Some cols => ans_eqb a (ARows cols (rows_of t (d_data w)))
-                       | None => is_error a
-                       end
-           | None => is_error a
-           end
-         | _ => match a with ARows _ _ | AHist _ _ => want_commit r v t a | _ => true end   (* refusing is fine; rows must be the right ones *)
-         end
-l    if revdb_denotes r v then want_commit r v t a
-    else match (norm_base r (fst v), snd v) with
-         | (BBranch b, []) =>                         (* dirty branch: `db/branch` is the branch's working set *)
-           match branch_working r b with
-           | Some w => match assoc t (d_schema w) with
-                       | Some cols => ans_eqb a (ARows cols (rows_of t (d_data w)))
-                       | None => is_error a
-                       end
-           | None => is_error a
-           end
-         | _ => match a with ARows _ _ | AHist _ _ => want_commit r v t a | _ => true end   (* refusing is fine; rows must be the right ones *)
-         end
-e    if revdb_denotes r v then want_commit r v t a
-    else match (norm_base r (fst v), snd v) with
-         | (BBranch b, []) =>                         (* dirty branch: `db/branch` is the branch's working set *)
-           match branch_working r b with
-           | Some w => match assoc t (d_schema w) with
-                       | Some cols => ans_eqb a (ARows cols (rows_of t (d_data w)))
-                       | None => is_error a
-                       end
-           | None => is_error a
-           end
-         | _ => match a with ARows _ _ | AHist _ _ => want_commit r v t a | _ => true end   (* refusing is fine; rows must be the right ones *)
-         end
-     if revdb_denotes r v then want_commit r v t a
-    else match (norm_base r (fst v), snd v) with
-         | (BBranch b, []) =>                         (* dirty branch: `db/branch` is the branch's working set *)
-           match branch_working r b with
-           | Some w => match assoc t (d_schema w) with
-                       | Some cols => ans_eqb a (ARows cols (rows_of t (d_data w)))
-                       | None => is_error a
-                       end
-           | None => is_error a
-           end
-         | _ => match a with ARows _ _ | AHist _ _ => want_commit r v t a | _ => true end   (* refusing is fine; rows must be the right ones *)
-         end
-(    if revdb_denotes r v then want_commit r v t a
-    else match (norm_base r (fst v), snd v) with
-         | (BBranch b, []) =>                         (* dirty branch: `db/branch` is the branch's working set *)
-           match branch_working r b with
-           | Some w => match assoc t (d_schema w) with
-                       | Some cols => ans_eqb a (ARows cols (rows_of t (d_data w)))
-                       | None => is_error a
-                       end
-           | None => is_error a
-           end
-         | _ => match a with ARows _ _ | AHist _ _ => want_commit r v t a | _ => true end   (* refusing is fine; rows must be the right ones *)
-         end
-i    if revdb_denotes r v then want_commit r v t a
-    else match (norm_base r (fst v), snd v) with
-         | (BBranch b, []) =>                         (* dirty branch: `db/branch` is the branch's working set *)
-           match branch_working r b with
-           | Some w => match assoc t (d_schema w) with
-                       | Some cols => ans_eqb a (ARows cols (rows_of t (d_data w)))
-                       | None => is_error a
-                       end
-           | None => is_error a
-           end
-         | _ => match a with ARows _ _ | AHist _ _ => want_commit r v t a | _ => true end   (* refusing is fine; rows must be the right ones *)
-         end
-     if revdb_denotes r v then want_commit r v t a
-    else match (norm_base r (fst v), snd v) with
-         | (BBranch b, []) =>                         (* dirty branch: `db/branch` is the branch's working set *)
-           match branch_working r b with
-           | Some w => match assoc t (d_schema w) with
-                       | Some cols => ans_eqb a (ARows cols (rows_of t (d_data w)))
-                       | None => is_error a
-                       end
-           | None => is_error a
-           end
-         | _ => match a with ARows _ _ | AHist _ _ => want_commit r v t a | _ => true end   (* refusing is fine; rows must be the right ones *)
-         end
-:    if revdb_denotes r v then want_commit r v t a
-    else match (norm_base r (fst v), snd v) with
-         | (BBranch b, []) =>                         (* dirty branch: `db/branch` is the branch's working set *)
-           match branch_working r b with
-           | Some w => match assoc t (d_schema w) with
-                       | Some cols => ans_eqb a (ARows cols (rows_of t (d_data w)))
-                       | None => is_error a
-                       end
-           | None => is_error a
-           end
-         | _ => match a with ARows _ _ | AHist _ _ => want_commit r v t a | _ => true end   (* refusing is fine; rows must be the right ones *)
-         end
-     if revdb_denotes r v then want_commit r v t a
-    else match (norm_base r (fst v), snd v) with
-         | (BBranch b, []) =>                         (* dirty branch: `db/branch` is the branch's working set *)
-           match branch_working r b with
-           | Some w => match assoc t (d_schema w) with
-                       | Some cols => ans_eqb a (ARows cols (rows_of t (d_data w)))
-                       | None => is_error a
-                       end
-           | None => is_error a
-           end
-         | _ => match a with ARows _ _ | AHist _ _ => want_commit r v t a | _ => true end   (* refusing is fine; rows must be the right ones *)
-         end
-i    if revdb_denotes r v then want_commit r v t a
-    else match (norm_base r (fst v), snd v) with
-         | (BBranch b, []) =>                         (* dirty branch: `db/branch` is the branch's working set *)
-           match branch_working r b with
-           | Some w => match assoc t (d_schema w) with
-                       | Some cols => ans_eqb a (ARows cols (rows_of t (d_data w)))
-                       | None => is_error a
-                       end
-           | None => is_error a
-           end
-         | _ => match a with ARows _ _ | AHist _ _ => want_commit r v t a | _ => true end   (* refusing is fine; rows must be the right ones *)
-         end
-n    if revdb_denotes r v then want_commit r v t a
-    else match (norm_base r (fst v), snd v) with
-         | (BBranch b, []) =>                         (* dirty branch: `db/branch` is the branch's working set *)
-           match branch_working r b with
-           | Some w => match assoc t (d_schema w) with
-                       | Some cols => ans_eqb a (ARows cols (rows_of t (d_data w)))
-                       | None => is_error a
-                       end
-           | None => is_error a
-           end
-         | _ => match a with ARows _ _ | AHist _ _ => want_commit r v t a | _ => true end   (* refusing is fine; rows must be the right ones *)
-         end
-p    if revdb_denotes r v then want_commit r v t a
-    else match (norm_base r (fst v), snd v) with
-         | (BBranch b, []) =>                         (* dirty branch: `db/branch` is the branch's working set *)
-           match branch_working r b with
-           | Some w => match assoc t (d_schema w) with
-                       | Some cols => ans_eqb a (ARows cols (rows_of t (d_data w)))
-                       | None => is_error a
-                       end
-           | None => is_error a
-           end
-         | _ => match a with ARows _ _ | AHist _ _ => want_commit r v t a | _ => true end   (* refusing is fine; rows must be the right ones *)
-         end
-u    if revdb_denotes r v then want_commit r v t a
-    else match (norm_base r (fst v), snd v) with
-         | (BBranch b, []) =>                         (* dirty branch: `db/branch` is the branch's working set *)
-           match branch_working r b with
-           | Some w => match assoc t (d_schema w) with
-                       | Some cols => ans_eqb a (ARows cols (rows_of t (d_data w)))
-                       | None => is_error a
-                       end
-           | None => is_error a
-           end
-         | _ => match a with ARows _ _ | AHist _ _ => want_commit r v t a | _ => true end   (* refusing is fine; rows must be the right ones *)
-         end
-t    if revdb_denotes r v then want_commit r v t a
-    else match (norm_base r (fst v), snd v) with
-         | (BBranch b, []) =>                         (* dirty branch: `db/branch` is the branch's working set *)
-           match branch_working r b with
-           | Some w => match assoc t (d_schema w) with
-                       | Some cols => ans_eqb a (ARows cols (rows_of t (d_data w)))
-                       | None => is_error a
-                       end
-           | None => is_error a
-           end
-         | _ => match a with ARows _ _ | AHist _ _ => want_commit r v t a | _ => true end   (* refusing is fine; rows must be the right ones *)
-         end
-)    if revdb_denotes r v then want_commit r v t a
-    else match (norm_base r (fst v), snd v) with
-         | (BBranch b, []) =>                         (* dirty branch: `db/branch` is the branch's working set *)
-           match branch_working r b with
-           | Some w => match assoc t (d_schema w) with
-                       | Some cols => ans_eqb a (ARows cols (rows_of t (d_data w)))
-                       | None => is_error a
-                       end
-           | None => is_error a
-           end
-         | _ => match a with ARows _ _ | AHist _ _ => want_commit r v t a | _ => true end   (* refusing is fine; rows must be the right ones *)
-         end
-     if revdb_denotes r v then want_commit r v t a
-    else match (norm_base r (fst v), snd v) with
-         | (BBranch b, []) =>                         (* dirty branch: `db/branch` is the branch's working set *)
-           match branch_working r b with
-           | Some w => match assoc t (d_schema w) with
-                       | Some cols => ans_eqb a (ARows cols (rows_of t (d_data w)))
-                       | None => is_error a
-                       end
-           | None => is_error a
-           end
-         | _ => match a with ARows _ _ | AHist _ _ => want_commit r v t a | _ => true end   (* refusing is fine; rows must be the right ones *)
-         end
-(    if revdb_denotes r v then want_commit r v t a
-    else match (norm_base r (fst v), snd v) with
-         | (BBranch b, []) =>                         (* dirty branch: `db/branch` is the branch's working set *)
-           match branch_working r b with
-           | Some w => match assoc t (d_schema w) with
-                       | Some cols => ans_eqb a (ARows cols (rows_of t (d_data w)))
-                       | None => is_error a
-                       end
-           | None => is_error a
-           end
-         | _ => match a with ARows _ _ | AHist _ _ => want_commit r v t a | _ => true end   (* refusing is fine; rows must be the right ones *)
-         end
-o    if revdb_denotes r v then want_commit r v t a
-    else match (norm_base r (fst v), snd v) with
-         | (BBranch b, []) =>                         (* dirty branch: `db/branch` is the branch's working set *)
-           match branch_working r b with
-           | Some w => match assoc t (d_schema w) with
-                       | Some cols => ans_eqb a (ARows cols (rows_of t (d_data w)))
-                       | None => is_error a
-                       end
-           | None => is_error a
-           end
-         | _ => match a with ARows _ _ | AHist _ _ => want_commit r v t a | _ => true end   (* refusing is fine; rows must be the right ones *)
-         end
-     if revdb_denotes r v then want_commit r v t a
-    else match (norm_base r (fst v), snd v) with
-         | (BBranch b, []) =>                         (* dirty branch: `db/branch` is the branch's working set *)
-           match branch_working r b with
-           | Some w => match assoc t (d_schema w) with
-                       | Some cols => ans_eqb a (ARows cols (rows_of t (d_data w)))
-                       | None => is_error a
-                       end
-           | None => is_error a
-           end
-         | _ => match a with ARows _ _ | AHist _ _ => want_commit r v t a | _ => true end   (* refusing is fine; rows must be the right ones *)
-         end
-:    if revdb_denotes r v then want_commit r v t a
-    else match (norm_base r (fst v), snd v) with
-         | (BBranch b, []) =>                         (* dirty branch: `db/branch` is the branch's working set *)
-           match branch_working r b with
-           | Some w => match assoc t (d_schema w) with
-                       | Some cols => ans_eqb a (ARows cols (rows_of t (d_data w)))
-                       | None => is_error a
-                       end
-           | None => is_error a
-           end
-         | _ => match a with ARows _ _ | AHist _ _ => want_commit r v t a | _ => true end   (* refusing is fine; rows must be the right ones *)
-         end
-     if revdb_denotes r v then want_commit r v t a
-    else match (norm_base r (fst v), snd v) with
-         | (BBranch b, []) =>                         (* dirty branch: `db/branch` is the branch's working set *)
-           match branch_working r b with
-           | Some w => match assoc t (d_schema w) with
-                       | Some cols => ans_eqb a (ARows cols (rows_of t (d_data w)))
-                       | None => is_error a
-                       end
-           | None => is_error a
-           end
-         | _ => match a with ARows _ _ | AHist _ _ => want_commit r v t a | _ => true end   (* refusing is fine; rows must be the right ones *)
-         end
-o    if revdb_denotes r v then want_commit r v t a
-    else match (norm_base r (fst v), snd v) with
-         | (BBranch b, []) =>                         (* dirty branch: `db/branch` is the branch's working set *)
-           match branch_working r b with
-           | Some w => match assoc t (d_schema w) with
-                       | Some cols => ans_eqb a (ARows cols (rows_of t (d_data w)))
-                       | None => is_error a
-                       end
-           | None => is_error a
-           end
-         | _ => match a with ARows _ _ | AHist _ _ => want_commit r v t a | _ => true end   (* refusing is fine; rows must be the right ones *)
-         end
-b    if revdb_denotes r v then want_commit r v t a
-    else match (norm_base r (fst v), snd v) with
-         | (BBranch b, []) =>                         (* dirty branch: `db/branch` is the branch's working set *)
-           match branch_working r b with
-           | Some w => match assoc t (d_schema w) with
-                       | Some cols => ans_eqb a (ARows cols (rows_of t (d_data w)))
-                       | None => is_error a
-                       end
-           | None => is_error a
-           end
-         | _ => match a with ARows _ _ | AHist _ _ => want_commit r v t a | _ => true end   (* refusing is fine; rows must be the right ones *)
-         end
-s    if revdb_denotes r v then want_commit r v t a
-    else match (norm_base r (fst v), snd v) with
-         | (BBranch b, []) =>                         (* dirty branch: `db/branch` is the branch's working set *)
-           match branch_working r b with
-           | Some w => match assoc t (d_schema w) with
-                       | Some cols => ans_eqb a (ARows cols (rows_of t (d_data w)))
-                       | None => is_error a
-                       end
-           | None => is_error a
-           end
-         | _ => match a with ARows _ _ | AHist _ _ => want_commit r v t a | _ => true end   (* refusing is fine; rows must be the right ones *)
-         end
-)    if revdb_denotes r v then want_commit r v t a
-    else match (norm_base r (fst v), snd v) with
-         | (BBranch b, []) =>                         (* dirty branch: `db/branch` is the branch's working set *)
-           match branch_working r b with
-           | Some w => match assoc t (d_schema w) with
-                       | Some cols => ans_eqb a (ARows cols (rows_of t (d_data w)))
-                       | None => is_error a
-                       end
-           | None => is_error a
-           end
-         | _ => match a with ARows _ _ | AHist _ _ => want_commit r v t a | _ => true end   (* refusing is fine; rows must be the right ones *)
-         end
-     if revdb_denotes r v then want_commit r v t a
-    else match (norm_base r (fst v), snd v) with
-         | (BBranch b, []) =>                         (* dirty branch: `db/branch` is the branch's working set *)
-           match branch_working r b with
-           | Some w => match assoc t (d_schema w) with
-                       | Some cols => ans_eqb a (ARows cols (rows_of t (d_data w)))
-                       | None => is_error a
-                       end
-           | None => is_error a
-           end
-         | _ => match a with ARows _ _ | AHist _ _ => want_commit r v t a | _ => true end   (* refusing is fine; rows must be the right ones *)
-         end
-:    if revdb_denotes r v then want_commit r v t a
-    else match (norm_base r (fst v), snd v) with
-         | (BBranch b, []) =>                         (* dirty branch: `db/branch` is the branch's working set *)
-           match branch_working r b with
-           | Some w => match assoc t (d_schema w) with
-                       | Some cols => ans_eqb a (ARows cols (rows_of t (d_data w)))
-                       | None => is_error a
-                       end
-           | None => is_error a
-           end
-         | _ => match a with ARows _ _ | AHist _ _ => want_commit r v t a | _ => true end   (* refusing is fine; rows must be the right ones *)
-         end
-     if revdb_denotes r v then want_commit r v t a
-    else match (norm_base r (fst v), snd v) with
-         | (BBranch b, []) =>                         (* dirty branch: `db/branch` is the branch's working set *)
-           match branch_working r b with
-           | Some w => match assoc t (d_schema w) with
-                       | Some cols => ans_eqb a (ARows cols (rows_of t (d_data w)))
-                       | None => is_error a
-                       end
-           | None => is_error a
-           end
-         | _ => match a with ARows _ _ | AHist _ _ => want_commit r v t a | _ => true end   (* refusing is fine; rows must be the right ones *)
-         end
-b    if revdb_denotes r v then want_commit r v t a
-    else match (norm_base r (fst v), snd v) with
-         | (BBranch b, []) =>                         (* dirty branch: `db/branch` is the branch's working set *)
-           match branch_working r b with
-           | Some w => match assoc t (d_schema w) with
-                       | Some cols => ans_eqb a (ARows cols (rows_of t (d_data w)))
-                       | None => is_error a
-                       end
-           | None => is_error a
-           end
-         | _ => match a with ARows _ _ | AHist _ _ => want_commit r v t a | _ => true end   (* refusing is fine; rows must be the right ones *)
-         end
-o    if revdb_denotes r v then want_commit r v t a
-    else match (norm_base r (fst v), snd v) with
-         | (BBranch b, []) =>                         (* dirty branch: `db/branch` is the branch's working set *)
-           match branch_working r b with
-           | Some w => match assoc t (d_schema w) with
-                       | Some cols => ans_eqb a (ARows cols (rows_of t (d_data w)))
-                       | None => is_error a
-                       end
-           | None => is_error a
-           end
-         | _ => match a with ARows _ _ | AHist _ _ => want_commit r v t a | _ => true end   (* refusing is fine; rows must be the right ones *)
-         end
-o    if revdb_denotes r v then want_commit r v t a
-    else match (norm_base r (fst v), snd v) with
-         | (BBranch b, []) =>                         (* dirty branch: `db/branch` is the branch's working set *)
-           match branch_working r b with
-           | Some w => match assoc t (d_schema w) with
-                       | Some cols => ans_eqb a (ARows cols (rows_of t (d_data w)))
-                       | None => is_error a
-                       end
-           | None => is_error a
-           end
-         | _ => match a with ARows _ _ | AHist _ _ => want_commit r v t a | _ => true end   (* refusing is fine; rows must be the right ones *)
-         end
-l    if revdb_denotes r v then want_commit r v t a
-    else match (norm_base r (fst v), snd v) with
-         | (BBranch b, []) =>                         (* dirty branch: `db/branch` is the branch's working set *)
-           match branch_working r b with
-           | Some w => match assoc t (d_schema w) with
-                       | Some cols => ans_eqb a (ARows cols (rows_of t (d_data w)))
-                       | None => is_error a
-                       end
-           | None => is_error a
-           end
-         | _ => match a with ARows _ _ | AHist _ _ => want_commit r v t a | _ => true end   (* refusing is fine; rows must be the right ones *)
-         end
-     if revdb_denotes r v then want_commit r v t a
-    else match (norm_base r (fst v), snd v) with
-         | (BBranch b, []) =>                         (* dirty branch: `db/branch` is the branch's working set *)
-           match branch_working r b with
-           | Some w => match assoc t (d_schema w) with
-                       | Some cols => ans_eqb a (ARows cols (rows_of t (d_data w)))
-                       | None => is_error a
-                       end
-           | None => is_error a
-           end
-         | _ => match a with ARows _ _ | AHist _ _ => want_commit r v t a | _ => true end   (* refusing is fine; rows must be the right ones *)
-         end
-:    if revdb_denotes r v then want_commit r v t a
-    else match (norm_base r (fst v), snd v) with
-         | (BBranch b, []) =>                         (* dirty branch: `db/branch` is the branch's working set *)
-           match branch_working r b with
-           | Some w => match assoc t (d_schema w) with
-                       | Some cols => ans_eqb a (ARows cols (rows_of t (d_data w)))
-                       | None => is_error a
-                       end
-           | None => is_error a
-           end
-         | _ => match a with ARows _ _ | AHist _ _ => want_commit r v t a | _ => true end   (* refusing is fine; rows must be the right ones *)
-         end
-=    if revdb_denotes r v then want_commit r v t a
-    else match (norm_base r (fst v), snd v) with
-         | (BBranch b, []) =>                         (* dirty branch: `db/branch` is the branch's working set *)
-           match branch_working r b with
-           | Some w => match assoc t (d_schema w) with
-                       | Some cols => ans_eqb a (ARows cols (rows_of t (d_data w)))
-                       | None => is_error a
-                       end
-           | None => is_error a
-           end
-         | _ => match a with ARows _ _ | AHist _ _ => want_commit r v t a | _ => true end   (* refusing is fine; rows must be the right ones *)
-         end
-
-    if revdb_denotes r v then want_commit r v t a
-    else match (norm_base r (fst v), snd v) with
-         | (BBranch b, []) =>                         (* dirty branch: `db/branch` is the branch's working set *)
-           match branch_working r b with
-           | Some w => match assoc t (d_schema w) with
-                       | Some cols => ans_eqb a (ARows cols (rows_of t (d_data w)))
-                       | None => is_error a
-                       end
-           | None => is_error a
-           end
-         | _ => match a with ARows _ _ | AHist _ _ => want_commit r v t a | _ => true end   (* refusing is fine; rows must be the right ones *)
-         end
-     if revdb_denotes r v then want_commit r v t a
-    else match (norm_base r (fst v), snd v) with
-         | (BBranch b, []) =>                         (* dirty branch: `db/branch` is the branch's working set *)
-           match branch_working r b with
-           | Some w => match assoc t (d_schema w) with
-                       | Some cols => ans_eqb a (ARows cols (rows_of t (d_data w)))
-                       | None => is_error a
-                       end
-           | None => is_error a
-           end
-         | _ => match a with ARows _ _ | AHist _ _ => want_commit r v t a | _ => true end   (* refusing is fine; rows must be the right ones *)
-         end
-     if revdb_denotes r v then want_commit r v t a
-    else match (norm_base r (fst v), snd v) with
-         | (BBranch b, []) =>                         (* dirty branch: `db/branch` is the branch's working set *)
-           match branch_working r b with
-           | Some w => match assoc t (d_schema w) with
-                       | Some cols => ans_eqb a (ARows cols (rows_of t (d_data w)))
-                       | None => is_error a
-                       end
-           | None => is_error a
-           end
-         | _ => match a with ARows _ _ | AHist _ _ => want_commit r v t a | _ => true end   (* refusing is fine; rows must be the right ones *)
-         end
-w    if revdb_denotes r v then want_commit r v t a
-    else match (norm_base r (fst v), snd v) with
-         | (BBranch b, []) =>                         (* dirty branch: `db/branch` is the branch's working set *)
-           match branch_working r b with
-           | Some w => match assoc t (d_schema w) with
-                       | Some cols => ans_eqb a (ARows cols (rows_of t (d_data w)))
-                       | None => is_error a
-                       end
-           | None => is_error a
-           end
-         | _ => match a with ARows _ _ | AHist _ _ => want_commit r v t a | _ => true end   (* refusing is fine; rows must be the right ones *)
-         end
-f    if revdb_denotes r v then want_commit r v t a
-    else match (norm_base r (fst v), snd v) with
-         | (BBranch b, []) =>                         (* dirty branch: `db/branch` is the branch's working set *)
-           match branch_working r b with
-           | Some w => match assoc t (d_schema w) with
-                       | Some cols => ans_eqb a (ARows cols (rows_of t (d_data w)))
-                       | None => is_error a
-                       end
-           | None => is_error a
-           end
-         | _ => match a with ARows _ _ | AHist _ _ => want_commit r v t a | _ => true end   (* refusing is fine; rows must be the right ones *)
-         end
-_    if revdb_denotes r v then want_commit r v t a
-    else match (norm_base r (fst v), snd v) with
-         | (BBranch b, []) =>                         (* dirty branch: `db/branch` is the branch's working set *)
-           match branch_working r b with
-           | Some w => match assoc t (d_schema w) with
-                       | Some cols => ans_eqb a (ARows cols (rows_of t (d_data w)))
-                       | None => is_error a
-                       end
-           | None => is_error a
-           end
-         | _ => match a with ARows _ _ | AHist _ _ => want_commit r v t a | _ => true end   (* refusing is fine; rows must be the right ones *)
-         end
-h    if revdb_denotes r v then want_commit r v t a
-    else match (norm_base r (fst v), snd v) with
-         | (BBranch b, []) =>                         (* dirty branch: `db/branch` is the branch's working set *)
-           match branch_working r b with
-           | Some w => match assoc t (d_schema w) with
-                       | Some cols => ans_eqb a (ARows cols (rows_of t (d_data w)))
-                       | None => is_error a
-                       end
-           | None => is_error a
-           end
-         | _ => match a with ARows _ _ | AHist _ _ => want_commit r v t a | _ => true end   (* refusing is fine; rows must be the right ones *)
-         end
-i    if revdb_denotes r v then want_commit r v t a
-    else match (norm_base r (fst v), snd v) with
-         | (BBranch b, []) =>                         (* dirty branch: `db/branch` is the branch's working set *)
-           match branch_working r b with
-           | Some w => match assoc t (d_schema w) with
-                       | Some cols => ans_eqb a (ARows cols (rows_of t (d_data w)))
-                       | None => is_error a
-                       end
-           | None => is_error a
-           end
-         | _ => match a with ARows _ _ | AHist _ _ => want_commit r v t a | _ => true end   (* refusing is fine; rows must be the right ones *)
-         end
-s    if revdb_denotes r v then want_commit r v t a
-    else match (norm_base r (fst v), snd v) with
-         | (BBranch b, []) =>                         (* dirty branch: `db/branch` is the branch's working set *)
-           match branch_working r b with
-           | Some w => match assoc t (d_schema w) with
-                       | Some cols => ans_eqb a (ARows cols (rows_of t (d_data w)))
-                       | None => is_error a
-                       end
-           | None => is_error a
-           end
-         | _ => match a with ARows _ _ | AHist _ _ => want_commit r v t a | _ => true end   (* refusing is fine; rows must be the right ones *)
-         end
-t    if revdb_denotes r v then want_commit r v t a
-    else match (norm_base r (fst v), snd v) with
-         | (BBranch b, []) =>                         (* dirty branch: `db/branch` is the branch's working set *)
-           match branch_working r b with
-           | Some w => match assoc t (d_schema w) with
-                       | Some cols => ans_eqb a (ARows cols (rows_of t (d_data w)))
-                       | None => is_error a
-                       end
-           | None => is_error a
-           end
-         | _ => match a with ARows _ _ | AHist _ _ => want_commit r v t a | _ => true end   (* refusing is fine; rows must be the right ones *)
-         end
-b    if revdb_denotes r v then want_commit r v t a
-    else match (norm_base r (fst v), snd v) with
-         | (BBranch b, []) =>                         (* dirty branch: `db/branch` is the branch's working set *)
-           match branch_working r b with
-           | Some w => match assoc t (d_schema w) with
-                       | Some cols => ans_eqb a (ARows cols (rows_of t (d_data w)))
-                       | None => is_error a
-                       end
-           | None => is_error a
-           end
-         | _ => match a with ARows _ _ | AHist _ _ => want_commit r v t a | _ => true end   (* refusing is fine; rows must be the right ones *)
-         end
-     if revdb_denotes r v then want_commit r v t a
-    else match (norm_base r (fst v), snd v) with
-         | (BBranch b, []) =>                         (* dirty branch: `db/branch` is the branch's working set *)
-           match branch_working r b with
-           | Some w => match assoc t (d_schema w) with
-                       | Some cols => ans_eqb a (ARows cols (rows_of t (d_data w)))
-                       | None => is_error a
-                       end
-           | None => is_error a
-           end
-         | _ => match a with ARows _ _ | AHist _ _ => want_commit r v t a | _ => true end   (* refusing is fine; rows must be the right ones *)
-         end
-(    if revdb_denotes r v then want_commit r v t a
-    else match (norm_base r (fst v), snd v) with
-         | (BBranch b, []) =>                         (* dirty branch: `db/branch` is the branch's working set *)
-           match branch_working r b with
-           | Some w => match assoc t (d_schema w) with
-                       | Some cols => ans_eqb a (ARows cols (rows_of t (d_data w)))
-                       | None => is_error a
-                       end
-           | None => is_error a
-           end
-         | _ => match a with ARows _ _ | AHist _ _ => want_commit r v t a | _ => true end   (* refusing is fine; rows must be the right ones *)
-         end
-r    if revdb_denotes r v then want_commit r v t a
-    else match (norm_base r (fst v), snd v) with
-         | (BBranch b, []) =>                         (* dirty branch: `db/branch` is the branch's working set *)
-           match branch_working r b with
-           | Some w => match assoc t (d_schema w) with
-                       | Some cols => ans_eqb a (ARows cols (rows_of t (d_data w)))
-                       | None => is_error a
-                       end
-           | None => is_error a
-           end
-         | _ => match a with ARows _ _ | AHist _ _ => want_commit r v t a | _ => true end   (* refusing is fine; rows must be the right ones *)
-         end
-_    if revdb_denotes r v then want_commit r v t a
-    else match (norm_base r (fst v), snd v) with
-         | (BBranch b, []) =>                         (* dirty branch: `db/branch` is the branch's working set *)
-           match branch_working r b with
-           | Some w => match assoc t (d_schema w) with
-                       | Some cols => ans_eqb a (ARows cols (rows_of t (d_data w)))
-                       | None => is_error a
-                       end
-           | None => is_error a
-           end
-         | _ => match a with ARows _ _ | AHist _ _ => want_commit r v t a | _ => true end   (* refusing is fine; rows must be the right ones *)
-         end
-h    if revdb_denotes r v then want_commit r v t a
-    else match (norm_base r (fst v), snd v) with
-         | (BBranch b, []) =>                         (* dirty branch: `db/branch` is the branch's working set *)
-           match branch_working r b with
-           | Some w => match assoc t (d_schema w) with
-                       | Some cols => ans_eqb a (ARows cols (rows_of t (d_data w)))
-                       | None => is_error a
-                       end
-           | None => is_error a
-           end
-         | _ => match a with ARows _ _ | AHist _ _ => want_commit r v t a | _ => true end   (* refusing is fine; rows must be the right ones *)
-         end
-i    if revdb_denotes r v then want_commit r v t a
-    else match (norm_base r (fst v), snd v) with
-         | (BBranch b, []) =>                         (* dirty branch: `db/branch` is the branch's working set *)
-           match branch_working r b with
-           | Some w => match assoc t (d_schema w) with
-                       | Some cols => ans_eqb a (ARows cols (rows_of t (d_data w)))
-                       | None => is_error a
-                       end
-           | None => is_error a
-           end
-         | _ => match a with ARows _ _ | AHist _ _ => want_commit r v t a | _ => true end   (* refusing is fine; rows must be the right ones *)
-         end
-s    if revdb_denotes r v then want_commit r v t a
-    else match (norm_base r (fst v), snd v) with
-         | (BBranch b, []) =>                         (* dirty branch: `db/branch` is the branch's working set *)
-           match branch_working r b with
-           | Some w => match assoc t (d_schema w) with
-                       | Some cols => ans_eqb a (ARows cols (rows_of t (d_data w)))
-                       | None => is_error a
-                       end
-           | None => is_error a
-           end
-         | _ => match a with ARows _ _ | AHist _ _ => want_commit r v t a | _ => true end   (* refusing is fine; rows must be the right ones *)
-         end
-t    if revdb_denotes r v then want_commit r v t a
-    else match (norm_base r (fst v), snd v) with
-         | (BBranch b, []) =>                         (* dirty branch: `db/branch` is the branch's working set *)
-           match branch_working r b with
-           | Some w => match assoc t (d_schema w) with
-                       | Some cols => ans_eqb a (ARows cols (rows_of t (d_data w)))
-                       | None => is_error a
-                       end
-           | None => is_error a
-           end
-         | _ => match a with ARows _ _ | AHist _ _ => want_commit r v t a | _ => true end   (* refusing is fine; rows must be the right ones *)
-         end
-     if revdb_denotes r v then want_commit r v t a
-    else match (norm_base r (fst v), snd v) with
-         | (BBranch b, []) =>                         (* dirty branch: `db/branch` is the branch's working set *)
-           match branch_working r b with
-           | Some w => match assoc t (d_schema w) with
-                       | Some cols => ans_eqb a (ARows cols (rows_of t (d_data w)))
-                       | None => is_error a
-                       end
-           | None => is_error a
-           end
-         | _ => match a with ARows _ _ | AHist _ _ => want_commit r v t a | _ => true end   (* refusing is fine; rows must be the right ones *)
-         end
-(    if revdb_denotes r v then want_commit r v t a
-    else match (norm_base r (fst v), snd v) with
-         | (BBranch b, []) =>                         (* dirty branch: `db/branch` is the branch's working set *)
-           match branch_working r b with
-           | Some w => match assoc t (d_schema w) with
-                       | Some cols => ans_eqb a (ARows cols (rows_of t (d_data w)))
-                       | None => is_error a
-                       end
-           | None => is_error a
-           end
-         | _ => match a with ARows _ _ | AHist _ _ => want_commit r v t a | _ => true end   (* refusing is fine; rows must be the right ones *)
-         end
-f    if revdb_denotes r v then want_commit r v t a
-    else match (norm_base r (fst v), snd v) with
-         | (BBranch b, []) =>                         (* dirty branch: `db/branch` is the branch's working set *)
-           match branch_working r b with
-           | Some w => match assoc t (d_schema w) with
-                       | Some cols => ans_eqb a (ARows cols (rows_of t (d_data w)))
-                       | None => is_error a
-                       end
-           | None => is_error a
-           end
-         | _ => match a with ARows _ _ | AHist _ _ => want_commit r v t a | _ => true end   (* refusing is fine; rows must be the right ones *)
-         end
-s    if revdb_denotes r v then want_commit r v t a
-    else match (norm_base r (fst v), snd v) with
-         | (BBranch b, []) =>                         (* dirty branch: `db/branch` is the branch's working set *)
-           match branch_working r b with
-           | Some w => match assoc t (d_schema w) with
-                       | Some cols => ans_eqb a (ARows cols (rows_of t (d_data w)))
-                       | None => is_error a
-                       end
-           | None => is_error a
-           end
-         | _ => match a with ARows _ _ | AHist _ _ => want_commit r v t a | _ => true end   (* refusing is fine; rows must be the right ones *)
-         end
-t    if revdb_denotes r v then want_commit r v t a
-    else match (norm_base r (fst v), snd v) with
-         | (BBranch b, []) =>                         (* dirty branch: `db/branch` is the branch's working set *)
-           match branch_working r b with
-           | Some w => match assoc t (d_schema w) with
-                       | Some cols => ans_eqb a (ARows cols (rows_of t (d_data w)))
-                       | None => is_error a
-                       end
-           | None => is_error a
-           end
-         | _ => match a with ARows _ _ | AHist _ _ => want_commit r v t a | _ => true end   (* refusing is fine; rows must be the right ones *)
-         end
-     if revdb_denotes r v then want_commit r v t a
-    else match (norm_base r (fst v), snd v) with
-         | (BBranch b, []) =>                         (* dirty branch: `db/branch` is the branch's working set *)
-           match branch_working r b with
-           | Some w => match assoc t (d_schema w) with
-                       | Some cols => ans_eqb a (ARows cols (rows_of t (d_data w)))
-                       | None => is_error a
-                       end
-           | None => is_error a
-           end
-         | _ => match a with ARows _ _ | AHist _ _ => want_commit r v t a | _ => true end   (* refusing is fine; rows must be the right ones *)
-         end
-i    if revdb_denotes r v then want_commit r v t a
-    else match (norm_base r (fst v), snd v) with
-         | (BBranch b, []) =>                         (* dirty branch: `db/branch` is the branch's working set *)
-           match branch_working r b with
-           | Some w => match assoc t (d_schema w) with
-                       | Some cols => ans_eqb a (ARows cols (rows_of t (d_data w)))
-                       | None => is_error a
-                       end
-           | None => is_error a
-           end
-         | _ => match a with ARows _ _ | AHist _ _ => want_commit r v t a | _ => true end   (* refusing is fine; rows must be the right ones *)
-         end
-)    if revdb_denotes r v then want_commit r v t a
-    else match (norm_base r (fst v), snd v) with
-         | (BBranch b, []) =>                         (* dirty branch: `db/branch` is the branch's working set *)
-           match branch_working r b with
-           | Some w => match assoc t (d_schema w) with
-                       | Some cols => ans_eqb a (ARows cols (rows_of t (d_data w)))
-                       | None => is_error a
-                       end
-           | None => is_error a
-           end
-         | _ => match a with ARows _ _ | AHist _ _ => want_commit r v t a | _ => true end   (* refusing is fine; rows must be the right ones *)
-         end
-)    if revdb_denotes r v then want_commit r v t a
-    else match (norm_base r (fst v), snd v) with
-         | (BBranch b, []) =>                         (* dirty branch: `db/branch` is the branch's working set *)
-           match branch_working r b with
-           | Some w => match assoc t (d_schema w) with
-                       | Some cols => ans_eqb a (ARows cols (rows_of t (d_data w)))
-                       | None => is_error a
-                       end
-           | None => is_error a
-           end
-         | _ => match a with ARows _ _ | AHist _ _ => want_commit r v t a | _ => true end   (* refusing is fine; rows must be the right ones *)
-         end
-     if revdb_denotes r v then want_commit r v t a
-    else match (norm_base r (fst v), snd v) with
-         | (BBranch b, []) =>                         (* dirty branch: `db/branch` is the branch's working set *)
-           match branch_working r b with
-           | Some w => match assoc t (d_schema w) with
-                       | Some cols => ans_eqb a (ARows cols (rows_of t (d_data w)))
-                       | None => is_error a
-                       end
-           | None => is_error a
-           end
-         | _ => match a with ARows _ _ | AHist _ _ => want_commit r v t a | _ => true end   (* refusing is fine; rows must be the right ones *)
-         end
-&    if revdb_denotes r v then want_commit r v t a
-    else match (norm_base r (fst v), snd v) with
-         | (BBranch b, []) =>                         (* dirty branch: `db/branch` is the branch's working set *)
-           match branch_working r b with
-           | Some w => match assoc t (d_schema w) with
-                       | Some cols => ans_eqb a (ARows cols (rows_of t (d_data w)))
-                       | None => is_error a
-                       end
-           | None => is_error a
-           end
-         | _ => match a with ARows _ _ | AHist _ _ => want_commit r v t a | _ => true end   (* refusing is fine; rows must be the right ones *)
-         end
-&    if revdb_denotes r v then want_commit r v t a
-    else match (norm_base r (fst v), snd v) with
-         | (BBranch b, []) =>                         (* dirty branch: `db/branch` is the branch's working set *)
-           match branch_working r b with
-           | Some w => match assoc t (d_schema w) with
-                       | Some cols => ans_eqb a (ARows cols (rows_of t (d_data w)))
-                       | None => is_error a
-                       end
-           | None => is_error a
-           end
-         | _ => match a with ARows _ _ | AHist _ _ => want_commit r v t a | _ => true end   (* refusing is fine; rows must be the right ones *)
-         end
-     if revdb_denotes r v then want_commit r v t a
-    else match (norm_base r (fst v), snd v) with
-         | (BBranch b, []) =>                         (* dirty branch: `db/branch` is the branch's working set *)
-           match branch_working r b with
-           | Some w => match assoc t (d_schema w) with
-                       | Some cols => ans_eqb a (ARows cols (rows_of t (d_data w)))
-                       | None => is_error a
-                       end
-           | None => is_error a
-           end
-         | _ => match a with ARows _ _ | AHist _ _ => want_commit r v t a | _ => true end   (* refusing is fine; rows must be the right ones *)
-         end
-p    if revdb_denotes r v then want_commit r v t a
-    else match (norm_base r (fst v), snd v) with
-         | (BBranch b, []) =>                         (* dirty branch: `db/branch` is the branch's working set *)
-           match branch_working r b with
-           | Some w => match assoc t (d_schema w) with
-                       | Some cols => ans_eqb a (ARows cols (rows_of t (d_data w)))
-                       | None => is_error a
-                       end
-           | None => is_error a
-           end
-         | _ => match a with ARows _ _ | AHist _ _ => want_commit r v t a | _ => true end   (* refusing is fine; rows must be the right ones *)
-         end
-r    if revdb_denotes r v then want_commit r v t a
-    else match (norm_base r (fst v), snd v) with
-         | (BBranch b, []) =>                         (* dirty branch: `db/branch` is the branch's working set *)
-           match branch_working r b with
-           | Some w => match assoc t (d_schema w) with
-                       | Some cols => ans_eqb a (ARows cols (rows_of t (d_data w)))
-                       | None => is_error a
-                       end
-           | None => is_error a
-           end
-         | _ => match a with ARows _ _ | AHist _ _ => want_commit r v t a | _ => true end   (* refusing is fine; rows must be the right ones *)
-         end
-o    if revdb_denotes r v then want_commit r v t a
-    else match (norm_base r (fst v), snd v) with
-         | (BBranch b, []) =>                         (* dirty branch: `db/branch` is the branch's working set *)
-           match branch_working r b with
-           | Some w => match assoc t (d_schema w) with
-                       | Some cols => ans_eqb a (ARows cols (rows_of t (d_data w)))
-                       | None => is_error a
-                       end
-           | None => is_error a
-           end
-         | _ => match a with ARows _ _ | AHist _ _ => want_commit r v t a | _ => true end   (* refusing is fine; rows must be the right ones *)
-         end
-p    if revdb_denotes r v then want_commit r v t a
-    else match (norm_base r (fst v), snd v) with
-         | (BBranch b, []) =>                         (* dirty branch: `db/branch` is the branch's working set *)
-           match branch_working r b with
-           | Some w => match assoc t (d_schema w) with
-                       | Some cols => ans_eqb a (ARows cols (rows_of t (d_data w)))
-                       | None => is_error a
-                       end
-           | None => is_error a
-           end
-         | _ => match a with ARows _ _ | AHist _ _ => want_commit r v t a | _ => true end   (* refusing is fine; rows must be the right ones *)
-         end
-_    if revdb_denotes r v then want_commit r v t a
-    else match (norm_base r (fst v), snd v) with
-         | (BBranch b, []) =>                         (* dirty branch: `db/branch` is the branch's working set *)
-           match branch_working r b with
-           | Some w => match assoc t (d_schema w) with
-                       | Some cols => ans_eqb a (ARows cols (rows_of t (d_data w)))
-                       | None => is_error a
-                       end
-           | None => is_error a
-           end
-         | _ => match a with ARows _ _ | AHist _ _ => want_commit r v t a | _ => true end   (* refusing is fine; rows must be the right ones *)
-         end
-a    if revdb_denotes r v then want_commit r v t a
-    else match (norm_base r (fst v), snd v) with
-         | (BBranch b, []) =>                         (* dirty branch: `db/branch` is the branch's working set *)
-           match branch_working r b with
-           | Some w => match assoc t (d_schema w) with
-                       | Some cols => ans_eqb a (ARows cols (rows_of t (d_data w)))
-                       | None => is_error a
-                       end
-           | None => is_error a
-           end
-         | _ => match a with ARows _ _ | AHist _ _ => want_commit r v t a | _ => true end   (* refusing is fine; rows must be the right ones *)
-         end
-l    if revdb_denotes r v then want_commit r v t a
-    else match (norm_base r (fst v), snd v) with
-         | (BBranch b, []) =>                         (* dirty branch: `db/branch` is the branch's working set *)
-           match branch_working r b with
-           | Some w => match assoc t (d_schema w) with
-                       | Some cols => ans_eqb a (ARows cols (rows_of t (d_data w)))
-                       | None => is_error a
-                       end
-           | None => is_error a
-           end
-         | _ => match a with ARows _ _ | AHist _ _ => want_commit r v t a | _ => true end   (* refusing is fine; rows must be the right ones *)
-         end
-l    if revdb_denotes r v then want_commit r v t a
-    else match (norm_base r (fst v), snd v) with
-         | (BBranch b, []) =>                         (* dirty branch: `db/branch` is the branch's working set *)
-           match branch_working r b with
-           | Some w => match assoc t (d_schema w) with
-                       | Some cols => ans_eqb a (ARows cols (rows_of t (d_data w)))
-                       | None => is_error a
-                       end
-           | None => is_error a
-           end
-         | _ => match a with ARows _ _ | AHist _ _ => want_commit r v t a | _ => true end   (* refusing is fine; rows must be the right ones *)
-         end
-     if revdb_denotes r v then want_commit r v t a
-    else match (norm_base r (fst v), snd v) with
-         | (BBranch b, []) =>                         (* dirty branch: `db/branch` is the branch's working set *)
-           match branch_working r b with
-           | Some w => match assoc t (d_schema w) with
-                       | Some cols => ans_eqb a (ARows cols (rows_of t (d_data w)))
-                       | None => is_error a
-                       end
-           | None => is_error a
-           end
-         | _ => match a with ARows _ _ | AHist _ _ => want_commit r v t a | _ => true end   (* refusing is fine; rows must be the right ones *)
-         end
-(    if revdb_denotes r v then want_commit r v t a
-    else match (norm_base r (fst v), snd v) with
-         | (BBranch b, []) =>                         (* dirty branch: `db/branch` is the branch's working set *)
-           match branch_working r b with
-           | Some w => match assoc t (d_schema w) with
-                       | Some cols => ans_eqb a (ARows cols (rows_of t (d_data w)))
-                       | None => is_error a
-                       end
-           | None => is_error a
-           end
-         | _ => match a with ARows _ _ | AHist _ _ => want_commit r v t a | _ => true end   (* refusing is fine; rows must be the right ones *)
-         end
-f    if revdb_denotes r v then want_commit r v t a
-    else match (norm_base r (fst v), snd v) with
-         | (BBranch b, []) =>                         (* dirty branch: `db/branch` is the branch's working set *)
-           match branch_working r b with
-           | Some w => match assoc t (d_schema w) with
-                       | Some cols => ans_eqb a (ARows cols (rows_of t (d_data w)))
-                       | None => is_error a
-                       end
-           | None => is_error a
-           end
-         | _ => match a with ARows _ _ | AHist _ _ => want_commit r v t a | _ => true end   (* refusing is fine; rows must be the right ones *)
-         end
-s    if revdb_denotes r v then want_commit r v t a
-    else match (norm_base r (fst v), snd v) with
-         | (BBranch b, []) =>                         (* dirty branch: `db/branch` is the branch's working set *)
-           match branch_working r b with
-           | Some w => match assoc t (d_schema w) with
-                       | Some cols => ans_eqb a (ARows cols (rows_of t (d_data w)))
-                       | None => is_error a
-                       end
-           | None => is_error a
-           end
-         | _ => match a with ARows _ _ | AHist _ _ => want_commit r v t a | _ => true end   (* refusing is fine; rows must be the right ones *)
-         end
-t    if revdb_denotes r v then want_commit r v t a
-    else match (norm_base r (fst v), snd v) with
-         | (BBranch b, []) =>                         (* dirty branch: `db/branch` is the branch's working set *)
-           match branch_working r b with
-           | Some w => match assoc t (d_schema w) with
-                       | Some cols => ans_eqb a (ARows cols (rows_of t (d_data w)))
-                       | None => is_error a
-                       end
-           | None => is_error a
-           end
-         | _ => match a with ARows _ _ | AHist _ _ => want_commit r v t a | _ => true end   (* refusing is fine; rows must be the right ones *)
-         end
-     if revdb_denotes r v then want_commit r v t a
-    else match (norm_base r (fst v), snd v) with
-         | (BBranch b, []) =>                         (* dirty branch: `db/branch` is the branch's working set *)
-           match branch_working r b with
-           | Some w => match assoc t (d_schema w) with
-                       | Some cols => ans_eqb a (ARows cols (rows_of t (d_data w)))
-                       | None => is_error a
-                       end
-           | None => is_error a
-           end
-         | _ => match a with ARows _ _ | AHist _ _ => want_commit r v t a | _ => true end   (* refusing is fine; rows must be the right ones *)
-         end
-i    if revdb_denotes r v then want_commit r v t a
-    else match (norm_base r (fst v), snd v) with
-         | (BBranch b, []) =>                         (* dirty branch: `db/branch` is the branch's working set *)
-           match branch_working r b with
-           | Some w => match assoc t (d_schema w) with
-                       | Some cols => ans_eqb a (ARows cols (rows_of t (d_data w)))
-                       | None => is_error a
-                       end
-           | None => is_error a
-           end
-         | _ => match a with ARows _ _ | AHist _ _ => want_commit r v t a | _ => true end   (* refusing is fine; rows must be the right ones *)
-         end
-)    if revdb_denotes r v then want_commit r v t a
-    else match (norm_base r (fst v), snd v) with
-         | (BBranch b, []) =>                         (* dirty branch: `db/branch` is the branch's working set *)
-           match branch_working r b with
-           | Some w => match assoc t (d_schema w) with
-                       | Some cols => ans_eqb a (ARows cols (rows_of t (d_data w)))
-                       | None => is_error a
-                       end
-           | None => is_error a
-           end
-         | _ => match a with ARows _ _ | AHist _ _ => want_commit r v t a | _ => true end   (* refusing is fine; rows must be the right ones *)
-         end
-     if revdb_denotes r v then want_commit r v t a
-    else match (norm_base r (fst v), snd v) with
-         | (BBranch b, []) =>                         (* dirty branch: `db/branch` is the branch's working set *)
-           match branch_working r b with
-           | Some w => match assoc t (d_schema w) with
-                       | Some cols => ans_eqb a (ARows cols (rows_of t (d_data w)))
-                       | None => is_error a
-                       end
-           | None => is_error a
-           end
-         | _ => match a with ARows _ _ | AHist _ _ => want_commit r v t a | _ => true end   (* refusing is fine; rows must be the right ones *)
-         end
-(    if revdb_denotes r v then want_commit r v t a
-    else match (norm_base r (fst v), snd v) with
-         | (BBranch b, []) =>                         (* dirty branch: `db/branch` is the branch's working set *)
-           match branch_working r b with
-           | Some w => match assoc t (d_schema w) with
-                       | Some cols => ans_eqb a (ARows cols (rows_of t (d_data w)))
-                       | None => is_error a
-                       end
-           | None => is_error a
-           end
-         | _ => match a with ARows _ _ | AHist _ _ => want_commit r v t a | _ => true end   (* refusing is fine; rows must be the right ones *)
-         end
-s    if revdb_denotes r v then want_commit r v t a
-    else match (norm_base r (fst v), snd v) with
-         | (BBranch b, []) =>                         (* dirty branch: `db/branch` is the branch's working set *)
-           match branch_working r b with
-           | Some w => match assoc t (d_schema w) with
-                       | Some cols => ans_eqb a (ARows cols (rows_of t (d_data w)))
-                       | None => is_error a
-                       end
-           | None => is_error a
-           end
-         | _ => match a with ARows _ _ | AHist _ _ => want_commit r v t a | _ => true end   (* refusing is fine; rows must be the right ones *)
-         end
-n    if revdb_denotes r v then want_commit r v t a
-    else match (norm_base r (fst v), snd v) with
-         | (BBranch b, []) =>                         (* dirty branch: `db/branch` is the branch's working set *)
-           match branch_working r b with
-           | Some w => match assoc t (d_schema w) with
-                       | Some cols => ans_eqb a (ARows cols (rows_of t (d_data w)))
-                       | None => is_error a
-                       end
-           | None => is_error a
-           end
-         | _ => match a with ARows _ _ | AHist _ _ => want_commit r v t a | _ => true end   (* refusing is fine; rows must be the right ones *)
-         end
-d    if revdb_denotes r v then want_commit r v t a
-    else match (norm_base r (fst v), snd v) with
-         | (BBranch b, []) =>                         (* dirty branch: `db/branch` is the branch's working set *)
-           match branch_working r b with
-           | Some w => match assoc t (d_schema w) with
-                       | Some cols => ans_eqb a (ARows cols (rows_of t (d_data w)))
-                       | None => is_error a
-                       end
-           | None => is_error a
-           end
-         | _ => match a with ARows _ _ | AHist _ _ => want_commit r v t a | _ => true end   (* refusing is fine; rows must be the right ones *)
-         end
-     if revdb_denotes r v then want_commit r v t a
-    else match (norm_base r (fst v), snd v) with
-         | (BBranch b, []) =>                         (* dirty branch: `db/branch` is the branch's working set *)
-           match branch_working r b with
-           | Some w => match assoc t (d_schema w) with
-                       | Some cols => ans_eqb a (ARows cols (rows_of t (d_data w)))
-                       | None => is_error a
-                       end
-           | None => is_error a
-           end
-         | _ => match a with ARows _ _ | AHist _ _ => want_commit r v t a | _ => true end   (* refusing is fine; rows must be the right ones *)
-         end
-i    if revdb_denotes r v then want_commit r v t a
-    else match (norm_base r (fst v), snd v) with
-         | (BBranch b, []) =>                         (* dirty branch: `db/branch` is the branch's working set *)
-           match branch_working r b with
-           | Some w => match assoc t (d_schema w) with
-                       | Some cols => ans_eqb a (ARows cols (rows_of t (d_data w)))
-                       | None => is_error a
-                       end
-           | None => is_error a
-           end
-         | _ => match a with ARows _ _ | AHist _ _ => want_commit r v t a | _ => true end   (* refusing is fine; rows must be the right ones *)
-         end
-)    if revdb_denotes r v then want_commit r v t a
-    else match (norm_base r (fst v), snd v) with
-         | (BBranch b, []) =>                         (* dirty branch: `db/branch` is the branch's working set *)
-           match branch_working r b with
-           | Some w => match assoc t (d_schema w) with
-                       | Some cols => ans_eqb a (ARows cols (rows_of t (d_data w)))
-                       | None => is_error a
-                       end
-           | None => is_error a
-           end
-         | _ => match a with ARows _ _ | AHist _ _ => want_commit r v t a | _ => true end   (* refusing is fine; rows must be the right ones *)
-         end
-     if revdb_denotes r v then want_commit r v t a
-    else match (norm_base r (fst v), snd v) with
-         | (BBranch b, []) =>                         (* dirty branch: `db/branch` is the branch's working set *)
-           match branch_working r b with
-           | Some w => match assoc t (d_schema w) with
-                       | Some cols => ans_eqb a (ARows cols (rows_of t (d_data w)))
-                       | None => is_error a
-                       end
-           | None => is_error a
-           end
-         | _ => match a with ARows _ _ | AHist _ _ => want_commit r v t a | _ => true end   (* refusing is fine; rows must be the right ones *)
-         end
-o    if revdb_denotes r v then want_commit r v t a
-    else match (norm_base r (fst v), snd v) with
-         | (BBranch b, []) =>                         (* dirty branch: `db/branch` is the branch's working set *)
-           match branch_working r b with
-           | Some w => match assoc t (d_schema w) with
-                       | Some cols => ans_eqb a (ARows cols (rows_of t (d_data w)))
-                       | None => is_error a
-                       end
-           | None => is_error a
-           end
-         | _ => match a with ARows _ _ | AHist _ _ => want_commit r v t a | _ => true end   (* refusing is fine; rows must be the right ones *)
-         end
-.    if revdb_denotes r v then want_commit r v t a
-    else match (norm_base r (fst v), snd v) with
-         | (BBranch b, []) =>                         (* dirty branch: `db/branch` is the branch's working set *)
-           match branch_working r b with
-           | Some w => match assoc t (d_schema w) with
-                       | Some cols => ans_eqb a (ARows cols (rows_of t (d_data w)))
-                       | None => is_error a
-                       end
-           | None => is_error a
-           end
-         | _ => match a with ARows _ _ | AHist _ _ => want_commit r v t a | _ => true end   (* refusing is fine; rows must be the right ones *)
-         end
-
-    if revdb_denotes r v then want_commit r v t a
-    else match (norm_base r (fst v), snd v) with
-         | (BBranch b, []) =>                         (* dirty branch: `db/branch` is the branch's working set *)
-           match branch_working r b with
-           | Some w => match assoc t (d_schema w) with
-                       | Some cols => ans_eqb a (ARows cols (rows_of t (d_data w)))
-                       | None => is_error a
-                       end
-           | None => is_error a
-           end
-         | _ => match a with ARows _ _ | AHist _ _ => want_commit r v t a | _ => true end   (* refusing is fine; rows must be the right ones *)
-         end
-
-    if revdb_denotes r v then want_commit r v t a
-    else match (norm_base r (fst v), snd v) with
-         | (BBranch b, []) =>                         (* dirty branch: `db/branch` is the branch's working set *)
-           match branch_working r b with
-           | Some w => match assoc t (d_schema w) with
-                       | Some cols => ans_eqb a (ARows cols (rows_of t (d_data w)))
-                       | None => is_error a
-                       end
-           | None => is_error a
-           end
-         | _ => match a with ARows _ _ | AHist _ _ => want_commit r v t a | _ => true end   (* refusing is fine; rows must be the right ones *)
-         end
-D    if revdb_denotes r v then want_commit r v t a
-    else match (norm_base r (fst v), snd v) with
-         | (BBranch b, []) =>                         (* dirty branch: `db/branch` is the branch's working set *)
-           match branch_working r b with
-           | Some w => match assoc t (d_schema w) with
-                       | Some cols => ans_eqb a (ARows cols (rows_of t (d_data w)))
-                       | None => is_error a
-                       end
-           | None => is_error a
-           end
-         | _ => match a with ARows _ _ | AHist _ _ => want_commit r v t a | _ => true end   (* refusing is fine; rows must be the right ones *)
-         end
-e    if revdb_denotes r v then want_commit r v t a
-    else match (norm_base r (fst v), snd v) with
-         | (BBranch b, []) =>                         (* dirty branch: `db/branch` is the branch's working set *)
-           match branch_working r b with
-           | Some w => match assoc t (d_schema w) with
-                       | Some cols => ans_eqb a (ARows cols (rows_of t (d_data w)))
-                       | None => is_error a
-                       end
-           | None => is_error a
-           end
-         | _ => match a with ARows _ _ | AHist _ _ => want_commit r v t a | _ => true end   (* refusing is fine; rows must be the right ones *)
-         end
-f    if revdb_denotes r v then want_commit r v t a
-    else match (norm_base r (fst v), snd v) with
-         | (BBranch b, []) =>                         (* dirty branch: `db/branch` is the branch's working set *)
-           match branch_working r b with
-           | Some w => match assoc t (d_schema w) with
-                       | Some cols => ans_eqb a (ARows cols (rows_of t (d_data w)))
-                       | None => is_error a
-                       end
-           | None => is_error a
-           end
-         | _ => match a with ARows _ _ | AHist _ _ => want_commit r v t a | _ => true end   (* refusing is fine; rows must be the right ones *)
-         end
-i    if revdb_denotes r v then want_commit r v t a
-    else match (norm_base r (fst v), snd v) with
-         | (BBranch b, []) =>                         (* dirty branch: `db/branch` is the branch's working set *)
-           match branch_working r b with
-           | Some w => match assoc t (d_schema w) with
-                       | Some cols => ans_eqb a (ARows cols (rows_of t (d_data w)))
-                       | None => is_error a
-                       end
-           | None => is_error a
-           end
-         | _ => match a with ARows _ _ | AHist _ _ => want_commit r v t a | _ => true end   (* refusing is fine; rows must be the right ones *)
-         end
-n    if revdb_denotes r v then want_commit r v t a
-    else match (norm_base r (fst v), snd v) with
-         | (BBranch b, []) =>                         (* dirty branch: `db/branch` is the branch's working set *)
-           match branch_working r b with
-           | Some w => match assoc t (d_schema w) with
-                       | Some cols => ans_eqb a (ARows cols (rows_of t (d_data w)))
-                       | None => is_error a
-                       end
-           | None => is_error a
-           end
-         | _ => match a with ARows _ _ | AHist _ _ => want_commit r v t a | _ => true end   (* refusing is fine; rows must be the right ones *)
-         end
-i    if revdb_denotes r v then want_commit r v t a
-    else match (norm_base r (fst v), snd v) with
-         | (BBranch b, []) =>                         (* dirty branch: `db/branch` is the branch's working set *)
-           match branch_working r b with
-           | Some w => match assoc t (d_schema w) with
-                       | Some cols => ans_eqb a (ARows cols (rows_of t (d_data w)))
-                       | None => is_error a
-                       end
-           | None => is_error a
-           end
-         | _ => match a with ARows _ _ | AHist _ _ => want_commit r v t a | _ => true end   (* refusing is fine; rows must be the right ones *)
-         end
-t    if revdb_denotes r v then want_commit r v t a
-    else match (norm_base r (fst v), snd v) with
-         | (BBranch b, []) =>                         (* dirty branch: `db/branch` is the branch's working set *)
-           match branch_working r b with
-           | Some w => match assoc t (d_schema w) with
-                       | Some cols => ans_eqb a (ARows cols (rows_of t (d_data w)))
-                       | None => is_error a
-                       end
-           | None => is_error a
-           end
-         | _ => match a with ARows _ _ | AHist _ _ => want_commit r v t a | _ => true end   (* refusing is fine; rows must be the right ones *)
-         end
-i    if revdb_denotes r v then want_commit r v t a
-    else match (norm_base r (fst v), snd v) with
-         | (BBranch b, []) =>                         (* dirty branch: `db/branch` is the branch's working set *)
-           match branch_working r b with
-           | Some w => match assoc t (d_schema w) with
-                       | Some cols => ans_eqb a (ARows cols (rows_of t (d_data w)))
-                       | None => is_error a
-                       end
-           | None => is_error a
-           end
-         | _ => match a with ARows _ _ | AHist _ _ => want_commit r v t a | _ => true end   (* refusing is fine; rows must be the right ones *)
-         end
-o    if revdb_denotes r v then want_commit r v t a
-    else match (norm_base r (fst v), snd v) with
-         | (BBranch b, []) =>                         (* dirty branch: `db/branch` is the branch's working set *)
-           match branch_working r b with
-           | Some w => match assoc t (d_schema w) with
-                       | Some cols => ans_eqb a (ARows cols (rows_of t (d_data w)))
-                       | None => is_error a
-                       end
-           | None => is_error a
-           end
-         | _ => match a with ARows _ _ | AHist _ _ => want_commit r v t a | _ => true end   (* refusing is fine; rows must be the right ones *)
-         end
-n    if revdb_denotes r v then want_commit r v t a
-    else match (norm_base r (fst v), snd v) with
-         | (BBranch b, []) =>                         (* dirty branch: `db/branch` is the branch's working set *)
-           match branch_working r b with
-           | Some w => match assoc t (d_schema w) with
-                       | Some cols => ans_eqb a (ARows cols (rows_of t (d_data w)))
-                       | None => is_error a
-                       end
-           | None => is_error a
-           end
-         | _ => match a with ARows _ _ | AHist _ _ => want_commit r v t a | _ => true end   (* refusing is fine; rows must be the right ones *)
-         end
-     if revdb_denotes r v then want_commit r v t a
-    else match (norm_base r (fst v), snd v) with
-         | (BBranch b, []) =>                         (* dirty branch: `db/branch` is the branch's working set *)
-           match branch_working r b with
-           | Some w => match assoc t (d_schema w) with
-                       | Some cols => ans_eqb a (ARows cols (rows_of t (d_data w)))
-                       | None => is_error a
-                       end
-           | None => is_error a
-           end
-         | _ => match a with ARows _ _ | AHist _ _ => want_commit r v t a | _ => true end   (* refusing is fine; rows must be the right ones *)
-         end
-c    if revdb_denotes r v then want_commit r v t a
-    else match (norm_base r (fst v), snd v) with
-         | (BBranch b, []) =>                         (* dirty branch: `db/branch` is the branch's working set *)
-           match branch_working r b with
-           | Some w => match assoc t (d_schema w) with
-                       | Some cols => ans_eqb a (ARows cols (rows_of t (d_data w)))
-                       | None => is_error a
-                       end
-           | None => is_error a
-           end
-         | _ => match a with ARows _ _ | AHist _ _ => want_commit r v t a | _ => true end   (* refusing is fine; rows must be the right ones *)
-         end
-h    if revdb_denotes r v then want_commit r v t a
-    else match (norm_base r (fst v), snd v) with
-         | (BBranch b, []) =>                         (* dirty branch: `db/branch` is the branch's working set *)
-           match branch_working r b with
-           | Some w => match assoc t (d_schema w) with
-                       | Some cols => ans_eqb a (ARows cols (rows_of t (d_data w)))
-                       | None => is_error a
-                       end
-           | None => is_error a
-           end
-         | _ => match a with ARows _ _ | AHist _ _ => want_commit r v t a | _ => true end   (* refusing is fine; rows must be the right ones *)
-         end
-e    if revdb_denotes r v then want_commit r v t a
-    else match (norm_base r (fst v), snd v) with
-         | (BBranch b, []) =>                         (* dirty branch: `db/branch` is the branch's working set *)
-           match branch_working r b with
-           | Some w => match assoc t (d_schema w) with
-                       | Some cols => ans_eqb a (ARows cols (rows_of t (d_data w)))
-                       | None => is_error a
-                       end
-           | None => is_error a
-           end
-         | _ => match a with ARows _ _ | AHist _ _ => want_commit r v t a | _ => true end   (* refusing is fine; rows must be the right ones *)
-         end
-c    if revdb_denotes r v then want_commit r v t a
-    else match (norm_base r (fst v), snd v) with
-         | (BBranch b, []) =>                         (* dirty branch: `db/branch` is the branch's working set *)
-           match branch_working r b with
-           | Some w => match assoc t (d_schema w) with
-                       | Some cols => ans_eqb a (ARows cols (rows_of t (d_data w)))
-                       | None => is_error a
-                       end
-           | None => is_error a
-           end
-         | _ => match a with ARows _ _ | AHist _ _ => want_commit r v t a | _ => true end   (* refusing is fine; rows must be the right ones *)
-         end
-k    if revdb_denotes r v then want_commit r v t a
-    else match (norm_base r (fst v), snd v) with
-         | (BBranch b, []) =>                         (* dirty branch: `db/branch` is the branch's working set *)
-           match branch_working r b with
-           | Some w => match assoc t (d_schema w) with
-                       | Some cols => ans_eqb a (ARows cols (rows_of t (d_data w)))
-                       | None => is_error a
-                       end
-           | None => is_error a
-           end
-         | _ => match a with ARows _ _ | AHist _ _ => want_commit r v t a | _ => true end   (* refusing is fine; rows must be the right ones *)
-         end
-_    if revdb_denotes r v then want_commit r v t a
-    else match (norm_base r (fst v), snd v) with
-         | (BBranch b, []) =>                         (* dirty branch: `db/branch` is the branch's working set *)
-           match branch_working r b with
-           | Some w => match assoc t (d_schema w) with
-                       | Some cols => ans_eqb a (ARows cols (rows_of t (d_data w)))
-                       | None => is_error a
-                       end
-           | None => is_error a
-           end
-         | _ => match a with ARows _ _ | AHist _ _ => want_commit r v t a | _ => true end   (* refusing is fine; rows must be the right ones *)
-         end
-c    if revdb_denotes r v then want_commit r v t a
-    else match (norm_base r (fst v), snd v) with
-         | (BBranch b, []) =>                         (* dirty branch: `db/branch` is the branch's working set *)
-           match branch_working r b with
-           | Some w => match assoc t (d_schema w) with
-                       | Some cols => ans_eqb a (ARows cols (rows_of t (d_data w)))
-                       | None => is_error a
-                       end
-           | None => is_error a
-           end
-         | _ => match a with ARows _ _ | AHist _ _ => want_commit r v t a | _ => true end   (* refusing is fine; rows must be the right ones *)
-         end
-a    if revdb_denotes r v then want_commit r v t a
-    else match (norm_base r (fst v), snd v) with
-         | (BBranch b, []) =>                         (* dirty branch: `db/branch` is the branch's working set *)
-           match branch_working r b with
-           | Some w => match assoc t (d_schema w) with
-                       | Some cols => ans_eqb a (ARows cols (rows_of t (d_data w)))
-                       | None => is_error a
-                       end
-           | None => is_error a
-           end
-         | _ => match a with ARows _ _ | AHist _ _ => want_commit r v t a | _ => true end   (* refusing is fine; rows must be the right ones *)
-         end
-s    if revdb_denotes r v then want_commit r v t a
-    else match (norm_base r (fst v), snd v) with
-         | (BBranch b, []) =>                         (* dirty branch: `db/branch` is the branch's working set *)
-           match branch_working r b with
-           | Some w => match assoc t (d_schema w) with
-                       | Some cols => ans_eqb a (ARows cols (rows_of t (d_data w)))
-                       | None => is_error a
-                       end
-           | None => is_error a
-           end
-         | _ => match a with ARows _ _ | AHist _ _ => want_commit r v t a | _ => true end   (* refusing is fine; rows must be the right ones *)
-         end
-e    if revdb_denotes r v then want_commit r v t a
-    else match (norm_base r (fst v), snd v) with
-         | (BBranch b, []) =>                         (* dirty branch: `db/branch` is the branch's working set *)
-           match branch_working r b with
-           | Some w => match assoc t (d_schema w) with
-                       | Some cols => ans_eqb a (ARows cols (rows_of t (d_data w)))
-                       | None => is_error a
-                       end
-           | None => is_error a
-           end
-         | _ => match a with ARows _ _ | AHist _ _ => want_commit r v t a | _ => true end   (* refusing is fine; rows must be the right ones *)
-         end
-     if revdb_denotes r v then want_commit r v t a
-    else match (norm_base r (fst v), snd v) with
-         | (BBranch b, []) =>                         (* dirty branch: `db/branch` is the branch's working set *)
-           match branch_working r b with
-           | Some w => match assoc t (d_schema w) with
-                       | Some cols => ans_eqb a (ARows cols (rows_of t (d_data w)))
-                       | None => is_error a
-                       end
-           | None => is_error a
-           end
-         | _ => match a with ARows _ _ | AHist _ _ => want_commit r v t a | _ => true end   (* refusing is fine; rows must be the right ones *)
-         end
-(    if revdb_denotes r v then want_commit r v t a
-    else match (norm_base r (fst v), snd v) with
-         | (BBranch b, []) =>                         (* dirty branch: `db/branch` is the branch's working set *)
-           match branch_working r b with
-           | Some w => match assoc t (d_schema w) with
-                       | Some cols => ans_eqb a (ARows cols (rows_of t (d_data w)))
-                       | None => is_error a
-                       end
-           | None => is_error a
-           end
-         | _ => match a with ARows _ _ | AHist _ _ => want_commit r v t a | _ => true end   (* refusing is fine; rows must be the right ones *)
-         end
-c    if revdb_denotes r v then want_commit r v t a
-    else match (norm_base r (fst v), snd v) with
-         | (BBranch b, []) =>                         (* dirty branch: `db/branch` is the branch's working set *)
-           match branch_working r b with
-           | Some w => match assoc t (d_schema w) with
-                       | Some cols => ans_eqb a (ARows cols (rows_of t (d_data w)))
-                       | None => is_error a
-                       end
-           | None => is_error a
-           end
-         | _ => match a with ARows _ _ | AHist _ _ => want_commit r v t a | _ => true end   (* refusing is fine; rows must be the right ones *)
-         end
-     if revdb_denotes r v then want_commit r v t a
-    else match (norm_base r (fst v), snd v) with
-         | (BBranch b, []) =>                         (* dirty branch: `db/branch` is the branch's working set *)
-           match branch_working r b with
-           | Some w => match assoc t (d_schema w) with
-                       | Some cols => ans_eqb a (ARows cols (rows_of t (d_data w)))
-                       | None => is_error a
-                       end
-           | None => is_error a
-           end
-         | _ => match a with ARows _ _ | AHist _ _ => want_commit r v t a | _ => true end   (* refusing is fine; rows must be the right ones *)
-         end
-:    if revdb_denotes r v then want_commit r v t a
-    else match (norm_base r (fst v), snd v) with
-         | (BBranch b, []) =>                         (* dirty branch: `db/branch` is the branch's working set *)
-           match branch_working r b with
-           | Some w => match assoc t (d_schema w) with
-                       | Some cols => ans_eqb a (ARows cols (rows_of t (d_data w)))
-                       | None => is_error a
-                       end
-           | None => is_error a
-           end
-         | _ => match a with ARows _ _ | AHist _ _ => want_commit r v t a | _ => true end   (* refusing is fine; rows must be the right ones *)
-         end
-     if revdb_denotes r v then want_commit r v t a
-    else match (norm_base r (fst v), snd v) with
-         | (BBranch b, []) =>                         (* dirty branch: `db/branch` is the branch's working set *)
-           match branch_working r b with
-           | Some w => match assoc t (d_schema w) with
-                       | Some cols => ans_eqb a (ARows cols (rows_of t (d_data w)))
-                       | None => is_error a
-                       end
-           | None => is_error a
-           end
-         | _ => match a with ARows _ _ | AHist _ _ => want_commit r v t a | _ => true end   (* refusing is fine; rows must be the right ones *)
-         end
-c    if revdb_denotes r v then want_commit r v t a
-    else match (norm_base r (fst v), snd v) with
-         | (BBranch b, []) =>                         (* dirty branch: `db/branch` is the branch's working set *)
-           match branch_working r b with
-           | Some w => match assoc t (d_schema w) with
-                       | Some cols => ans_eqb a (ARows cols (rows_of t (d_data w)))
-                       | None => is_error a
-                       end
-           | None => is_error a
-           end
-         | _ => match a with ARows _ _ | AHist _ _ => want_commit r v t a | _ => true end   (* refusing is fine; rows must be the right ones *)
-         end
-a    if revdb_denotes r v then want_commit r v t a
-    else match (norm_base r (fst v), snd v) with
-         | (BBranch b, []) =>                         (* dirty branch: `db/branch` is the branch's working set *)
-           match branch_working r b with
-           | Some w => match assoc t (d_schema w) with
-                       | Some cols => ans_eqb a (ARows cols (rows_of t (d_data w)))
-                       | None => is_error a
-                       end
-           | None => is_error a
-           end
-         | _ => match a with ARows _ _ | AHist _ _ => want_commit r v t a | _ => true end   (* refusing is fine; rows must be the right ones *)
-         end
-s    if revdb_denotes r v then want_commit r v t a
-    else match (norm_base r (fst v), snd v) with
-         | (BBranch b, []) =>                         (* dirty branch: `db/branch` is the branch's working set *)
-           match branch_working r b with
-           | Some w => match assoc t (d_schema w) with
-                       | Some cols => ans_eqb a (ARows cols (rows_of t (d_data w)))
-                       | None => is_error a
-                       end
-           | None => is_error a
-           end
-         | _ => match a with ARows _ _ | AHist _ _ => want_commit r v t a | _ => true end   (* refusing is fine; rows must be the right ones *)
-         end
-e    if revdb_denotes r v then want_commit r v t a
-    else match (norm_base r (fst v), snd v) with
-         | (BBranch b, []) =>                         (* dirty branch: `db/branch` is the branch's working set *)
-           match branch_working r b with
-           | Some w => match assoc t (d_schema w) with
-                       | Some cols => ans_eqb a (ARows cols (rows_of t (d_data w)))
-                       | None => is_error a
-                       end
-           | None => is_error a
-           end
-         | _ => match a with ARows _ _ | AHist _ _ => want_commit r v t a | _ => true end   (* refusing is fine; rows must be the right ones *)
-         end
-)    if revdb_denotes r v then want_commit r v t a
-    else match (norm_base r (fst v), snd v) with
-         | (BBranch b, []) =>                         (* dirty branch: `db/branch` is the branch's working set *)
-           match branch_working r b with
-           | Some w => match assoc t (d_schema w) with
-                       | Some cols => ans_eqb a (ARows cols (rows_of t (d_data w)))
-                       | None => is_error a
-                       end
-           | None => is_error a
-           end
-         | _ => match a with ARows _ _ | AHist _ _ => want_commit r v t a | _ => true end   (* refusing is fine; rows must be the right ones *)
-         end
-     if revdb_denotes r v then want_commit r v t a
-    else match (norm_base r (fst v), snd v) with
-         | (BBranch b, []) =>                         (* dirty branch: `db/branch` is the branch's working set *)
-           match branch_working r b with
-           | Some w => match assoc t (d_schema w) with
-                       | Some cols => ans_eqb a (ARows cols (rows_of t (d_data w)))
-                       | None => is_error a
-                       end
-           | None => is_error a
-           end
-         | _ => match a with ARows _ _ | AHist _ _ => want_commit r v t a | _ => true end   (* refusing is fine; rows must be the right ones *)
-         end
-:    if revdb_denotes r v then want_commit r v t a
-    else match (norm_base r (fst v), snd v) with
-         | (BBranch b, []) =>                         (* dirty branch: `db/branch` is the branch's working set *)
-           match branch_working r b with
-           | Some w => match assoc t (d_schema w) with
-                       | Some cols => ans_eqb a (ARows cols (rows_of t (d_data w)))
-                       | None => is_error a
-                       end
-           | None => is_error a
-           end
-         | _ => match a with ARows _ _ | AHist _ _ => want_commit r v t a | _ => true end   (* refusing is fine; rows must be the right ones *)
-         end
-     if revdb_denotes r v then want_commit r v t a
-    else match (norm_base r (fst v), snd v) with
-         | (BBranch b, []) =>                         (* dirty branch: `db/branch` is the branch's working set *)
-           match branch_working r b with
-           | Some w => match assoc t (d_schema w) with
-                       | Some cols => ans_eqb a (ARows cols (rows_of t (d_data w)))
-                       | None => is_error a
-                       end
-           | None => is_error a
-           end
-         | _ => match a with ARows _ _ | AHist _ _ => want_commit r v t a | _ => true end   (* refusing is fine; rows must be the right ones *)
-         end
-N    if revdb_denotes r v then want_commit r v t a
-    else match (norm_base r (fst v), snd v) with
-         | (BBranch b, []) =>                         (* dirty branch: `db/branch` is the branch's working set *)
-           match branch_working r b with
-           | Some w => match assoc t (d_schema w) with
-                       | Some cols => ans_eqb a (ARows cols (rows_of t (d_data w)))
-                       | None => is_error a
-                       end
-           | None => is_error a
-           end
-         | _ => match a with ARows _ _ | AHist _ _ => want_commit r v t a | _ => true end   (* refusing is fine; rows must be the right ones *)
-         end
-     if revdb_denotes r v then want_commit r v t a
-    else match (norm_base r (fst v), snd v) with
-         | (BBranch b, []) =>                         (* dirty branch: `db/branch` is the branch's working set *)
-           match branch_working r b with
-           | Some w => match assoc t (d_schema w) with
-                       | Some cols => ans_eqb a (ARows cols (rows_of t (d_data w)))
-                       | None => is_error a
-                       end
-           | None => is_error a
-           end
-         | _ => match a with ARows _ _ | AHist _ _ => want_commit r v t a | _ => true end   (* refusing is fine; rows must be the right ones *)
-         end
-:    if revdb_denotes r v then want_commit r v t a
-    else match (norm_base r (fst v), snd v) with
-         | (BBranch b, []) =>                         (* dirty branch: `db/branch` is the branch's working set *)
-           match branch_working r b with
-           | Some w => match assoc t (d_schema w) with
-                       | Some cols => ans_eqb a (ARows cols (rows_of t (d_data w)))
-                       | None => is_error a
-                       end
-           | None => is_error a
-           end
-         | _ => match a with ARows _ _ | AHist _ _ => want_commit r v t a | _ => true end   (* refusing is fine; rows must be the right ones *)
-         end
-=    if revdb_denotes r v then want_commit r v t a
-    else match (norm_base r (fst v), snd v) with
-         | (BBranch b, []) =>                         (* dirty branch: `db/branch` is the branch's working set *)
-           match branch_working r b with
-           | Some w => match assoc t (d_schema w) with
-                       | Some cols => ans_eqb a (ARows cols (rows_of t (d_data w)))
-                       | None => is_error a
-                       end
-           | None => is_error a
-           end
-         | _ => match a with ARows _ _ | AHist _ _ => want_commit r v t a | _ => true end   (* refusing is fine; rows must be the right ones *)
-         end
-
-    if revdb_denotes r v then want_commit r v t a
-    else match (norm_base r (fst v), snd v) with
-         | (BBranch b, []) =>                         (* dirty branch: `db/branch` is the branch's working set *)
-           match branch_working r b with
-           | Some w => match assoc t (d_schema w) with
-                       | Some cols => ans_eqb a (ARows cols (rows_of t (d_data w)))
-                       | None => is_error a
-                       end
-           | None => is_error a
-           end
-         | _ => match a with ARows _ _ | AHist _ _ => want_commit r v t a | _ => true end   (* refusing is fine; rows must be the right ones *)
-         end
-     if revdb_denotes r v then want_commit r v t a
-    else match (norm_base r (fst v), snd v) with
-         | (BBranch b, []) =>                         (* dirty branch: `db/branch` is the branch's working set *)
-           match branch_working r b with
-           | Some w => match assoc t (d_schema w) with
-                       | Some cols => ans_eqb a (ARows cols (rows_of t (d_data w)))
-                       | None => is_error a
-                       end
-           | None => is_error a
-           end
-         | _ => match a with ARows _ _ | AHist _ _ => want_commit r v t a | _ => true end   (* refusing is fine; rows must be the right ones *)
-         end
-     if revdb_denotes r v then want_commit r v t a
-    else match (norm_base r (fst v), snd v) with
-         | (BBranch b, []) =>                         (* dirty branch: `db/branch` is the branch's working set *)
-           match branch_working r b with
-           | Some w => match assoc t (d_schema w) with
-                       | Some cols => ans_eqb a (ARows cols (rows_of t (d_data w)))
-                       | None => is_error a
-                       end
-           | None => is_error a
-           end
-         | _ => match a with ARows _ _ | AHist _ _ => want_commit r v t a | _ => true end   (* refusing is fine; rows must be the right ones *)
-         end
-(    if revdb_denotes r v then want_commit r v t a
-    else match (norm_base r (fst v), snd v) with
-         | (BBranch b, []) =>                         (* dirty branch: `db/branch` is the branch's working set *)
-           match branch_working r b with
-           | Some w => match assoc t (d_schema w) with
-                       | Some cols => ans_eqb a (ARows cols (rows_of t (d_data w)))
-                       | None => is_error a
-                       end
-           | None => is_error a
-           end
-         | _ => match a with ARows _ _ | AHist _ _ => want_commit r v t a | _ => true end   (* refusing is fine; rows must be the right ones *)
-         end
-i    if revdb_denotes r v then want_commit r v t a
-    else match (norm_base r (fst v), snd v) with
-         | (BBranch b, []) =>                         (* dirty branch: `db/branch` is the branch's working set *)
-           match branch_working r b with
-           | Some w => match assoc t (d_schema w) with
-                       | Some cols => ans_eqb a (ARows cols (rows_of t (d_data w)))
-                       | None => is_error a
-                       end
-           | None => is_error a
-           end
-         | _ => match a with ARows _ _ | AHist _ _ => want_commit r v t a | _ => true end   (* refusing is fine; rows must be the right ones *)
-         end
-f    if revdb_denotes r v then want_commit r v t a
-    else match (norm_base r (fst v), snd v) with
-         | (BBranch b, []) =>                         (* dirty branch: `db/branch` is the branch's working set *)
-           match branch_working r b with
-           | Some w => match assoc t (d_schema w) with
-                       | Some cols => ans_eqb a (ARows cols (rows_of t (d_data w)))
-                       | None => is_error a
-                       end
-           | None => is_error a
-           end
-         | _ => match a with ARows _ _ | AHist _ _ => want_commit r v t a | _ => true end   (* refusing is fine; rows must be the right ones *)
-         end
-     if revdb_denotes r v then want_commit r v t a
-    else match (norm_base r (fst v), snd v) with
-         | (BBranch b, []) =>                         (* dirty branch: `db/branch` is the branch's working set *)
-           match branch_working r b with
-           | Some w => match assoc t (d_schema w) with
-                       | Some cols => ans_eqb a (ARows cols (rows_of t (d_data w)))
-                       | None => is_error a
-                       end
-           | None => is_error a
-           end
-         | _ => match a with ARows _ _ | AHist _ _ => want_commit r v t a | _ => true end   (* refusing is fine; rows must be the right ones *)
-         end
-o    if revdb_denotes r v then want_commit r v t a
-    else match (norm_base r (fst v), snd v) with
-         | (BBranch b, []) =>                         (* dirty branch: `db/branch` is the branch's working set *)
-           match branch_working r b with
-           | Some w => match assoc t (d_schema w) with
-                       | Some cols => ans_eqb a (ARows cols (rows_of t (d_data w)))
-                       | None => is_error a
-                       end
-           | None => is_error a
-           end
-         | _ => match a with ARows _ _ | AHist _ _ => want_commit r v t a | _ => true end   (* refusing is fine; rows must be the right ones *)
-         end
-b    if revdb_denotes r v then want_commit r v t a
-    else match (norm_base r (fst v), snd v) with
-         | (BBranch b, []) =>                         (* dirty branch: `db/branch` is the branch's working set *)
-           match branch_working r b with
-           | Some w => match assoc t (d_schema w) with
-                       | Some cols => ans_eqb a (ARows cols (rows_of t (d_data w)))
-                       | None => is_error a
-                       end
-           | None => is_error a
-           end
-         | _ => match a with ARows _ _ | AHist _ _ => want_commit r v t a | _ => true end   (* refusing is fine; rows must be the right ones *)
-         end
-s    if revdb_denotes r v then want_commit r v t a
-    else match (norm_base r (fst v), snd v) with
-         | (BBranch b, []) =>                         (* dirty branch: `db/branch` is the branch's working set *)
-           match branch_working r b with
-           | Some w => match assoc t (d_schema w) with
-                       | Some cols => ans_eqb a (ARows cols (rows_of t (d_data w)))
-                       | None => is_error a
-                       end
-           | None => is_error a
-           end
-         | _ => match a with ARows _ _ | AHist _ _ => want_commit r v t a | _ => true end   (* refusing is fine; rows must be the right ones *)
-         end
-_    if revdb_denotes r v then want_commit r v t a
-    else match (norm_base r (fst v), snd v) with
-         | (BBranch b, []) =>                         (* dirty branch: `db/branch` is the branch's working set *)
-           match branch_working r b with
-           | Some w => match assoc t (d_schema w) with
-                       | Some cols => ans_eqb a (ARows cols (rows_of t (d_data w)))
-                       | None => is_error a
-                       end
-           | None => is_error a
-           end
-         | _ => match a with ARows _ _ | AHist _ _ => want_commit r v t a | _ => true end   (* refusing is fine; rows must be the right ones *)
-         end
-e    if revdb_denotes r v then want_commit r v t a
-    else match (norm_base r (fst v), snd v) with
-         | (BBranch b, []) =>                         (* dirty branch: `db/branch` is the branch's working set *)
-           match branch_working r b with
-           | Some w => match assoc t (d_schema w) with
-                       | Some cols => ans_eqb a (ARows cols (rows_of t (d_data w)))
-                       | None => is_error a
-                       end
-           | None => is_error a
-           end
-         | _ => match a with ARows _ _ | AHist _ _ => want_commit r v t a | _ => true end   (* refusing is fine; rows must be the right ones *)
-         end
-q    if revdb_denotes r v then want_commit r v t a
-    else match (norm_base r (fst v), snd v) with
-         | (BBranch b, []) =>                         (* dirty branch: `db/branch` is the branch's working set *)
-           match branch_working r b with
-           | Some w => match assoc t (d_schema w) with
-                       | Some cols => ans_eqb a (ARows cols (rows_of t (d_data w)))
-                       | None => is_error a
-                       end
-           | None => is_error a
-           end
-         | _ => match a with ARows _ _ | AHist _ _ => want_commit r v t a | _ => true end   (* refusing is fine; rows must be the right ones *)
-         end
-b    if revdb_denotes r v then want_commit r v t a
-    else match (norm_base r (fst v), snd v) with
-         | (BBranch b, []) =>                         (* dirty branch: `db/branch` is the branch's working set *)
-           match branch_working r b with
-           | Some w => match assoc t (d_schema w) with
-                       | Some cols => ans_eqb a (ARows cols (rows_of t (d_data w)))
-                       | None => is_error a
-                       end
-           | None => is_error a
-           end
-         | _ => match a with ARows _ _ | AHist _ _ => want_commit r v t a | _ => true end   (* refusing is fine; rows must be the right ones *)
-         end
-     if revdb_denotes r v then want_commit r v t a
-    else match (norm_base r (fst v), snd v) with
-         | (BBranch b, []) =>                         (* dirty branch: `db/branch` is the branch's working set *)
-           match branch_working r b with
-           | Some w => match assoc t (d_schema w) with
-                       | Some cols => ans_eqb a (ARows cols (rows_of t (d_data w)))
-                       | None => is_error a
-                       end
-           | None => is_error a
-           end
-         | _ => match a with ARows _ _ | AHist _ _ => want_commit r v t a | _ => true end   (* refusing is fine; rows must be the right ones *)
-         end
-(    if revdb_denotes r v then want_commit r v t a
-    else match (norm_base r (fst v), snd v) with
-         | (BBranch b, []) =>                         (* dirty branch: `db/branch` is the branch's working set *)
-           match branch_working r b with
-           | Some w => match assoc t (d_schema w) with
-                       | Some cols => ans_eqb a (ARows cols (rows_of t (d_data w)))
-                       | None => is_error a
-                       end
-           | None => is_error a
-           end
-         | _ => match a with ARows _ _ | AHist _ _ => want_commit r v t a | _ => true end   (* refusing is fine; rows must be the right ones *)
-         end
-m    if revdb_denotes r v then want_commit r v t a
-    else match (norm_base r (fst v), snd v) with
-         | (BBranch b, []) =>                         (* dirty branch: `db/branch` is the branch's working set *)
-           match branch_working r b with
-           | Some w => match assoc t (d_schema w) with
-                       | Some cols => ans_eqb a (ARows cols (rows_of t (d_data w)))
-                       | None => is_error a
-                       end
-           | None => is_error a
-           end
-         | _ => match a with ARows _ _ | AHist _ _ => want_commit r v t a | _ => true end   (* refusing is fine; rows must be the right ones *)
-         end
-o    if revdb_denotes r v then want_commit r v t a
-    else match (norm_base r (fst v), snd v) with
-         | (BBranch b, []) =>                         (* dirty branch: `db/branch` is the branch's working set *)
-           match branch_working r b with
-           | Some w => match assoc t (d_schema w) with
-                       | Some cols => ans_eqb a (ARows cols (rows_of t (d_data w)))
-                       | None => is_error a
-                       end
-           | None => is_error a
-           end
-         | _ => match a with ARows _ _ | AHist _ _ => want_commit r v t a | _ => true end   (* refusing is fine; rows must be the right ones *)
-         end
-d    if revdb_denotes r v then want_commit r v t a
-    else match (norm_base r (fst v), snd v) with
-         | (BBranch b, []) =>                         (* dirty branch: `db/branch` is the branch's working set *)
-           match branch_working r b with
-           | Some w => match assoc t (d_schema w) with
-                       | Some cols => ans_eqb a (ARows cols (rows_of t (d_data w)))
-                       | None => is_error a
-                       end
-           | None => is_error a
-           end
-         | _ => match a with ARows _ _ | AHist _ _ => want_commit r v t a | _ => true end   (* refusing is fine; rows must be the right ones *)
-         end
-e    if revdb_denotes r v then want_commit r v t a
-    else match (norm_base r (fst v), snd v) with
-         | (BBranch b, []) =>                         (* dirty branch: `db/branch` is the branch's working set *)
-           match branch_working r b with
-           | Some w => match assoc t (d_schema w) with
-                       | Some cols => ans_eqb a (ARows cols (rows_of t (d_data w)))
-                       | None => is_error a
-                       end
-           | None => is_error a
-           end
-         | _ => match a with ARows _ _ | AHist _ _ => want_commit r v t a | _ => true end   (* refusing is fine; rows must be the right ones *)
-         end
-l    if revdb_denotes r v then want_commit r v t a
-    else match (norm_base r (fst v), snd v) with
-         | (BBranch b, []) =>                         (* dirty branch: `db/branch` is the branch's working set *)
-           match branch_working r b with
-           | Some w => match assoc t (d_schema w) with
-                       | Some cols => ans_eqb a (ARows cols (rows_of t (d_data w)))
-                       | None => is_error a
-                       end
-           | None => is_error a
-           end
-         | _ => match a with ARows _ _ | AHist _ _ => want_commit r v t a | _ => true end   (* refusing is fine; rows must be the right ones *)
-         end
-_    if revdb_denotes r v then want_commit r v t a
-    else match (norm_base r (fst v), snd v) with
-         | (BBranch b, []) =>                         (* dirty branch: `db/branch` is the branch's working set *)
-           match branch_working r b with
-           | Some w => match assoc t (d_schema w) with
-                       | Some cols => ans_eqb a (ARows cols (rows_of t (d_data w)))
-                       | None => is_error a
-                       end
-           | None => is_error a
-           end
-         | _ => match a with ARows _ _ | AHist _ _ => want_commit r v t a | _ => true end   (* refusing is fine; rows must be the right ones *)
-         end
-o    if revdb_denotes r v then want_commit r v t a
-    else match (norm_base r (fst v), snd v) with
-         | (BBranch b, []) =>                         (* dirty branch: `db/branch` is the branch's working set *)
-           match branch_working r b with
-           | Some w => match assoc t (d_schema w) with
-                       | Some cols => ans_eqb a (ARows cols (rows_of t (d_data w)))
-                       | None => is_error a
-                       end
-           | None => is_error a
-           end
-         | _ => match a with ARows _ _ | AHist _ _ => want_commit r v t a | _ => true end   (* refusing is fine; rows must be the right ones *)
-         end
-b    if revdb_denotes r v then want_commit r v t a
-    else match (norm_base r (fst v), snd v) with
-         | (BBranch b, []) =>                         (* dirty branch: `db/branch` is the branch's working set *)
-           match branch_working r b with
-           | Some w => match assoc t (d_schema w) with
-                       | Some cols => ans_eqb a (ARows cols (rows_of t (d_data w)))
-                       | None => is_error a
-                       end
-           | None => is_error a
-           end
-         | _ => match a with ARows _ _ | AHist _ _ => want_commit r v t a | _ => true end   (* refusing is fine; rows must be the right ones *)
-         end
-s    if revdb_denotes r v then want_commit r v t a
-    else match (norm_base r (fst v), snd v) with
-         | (BBranch b, []) =>                         (* dirty branch: `db/branch` is the branch's working set *)
-           match branch_working r b with
-           | Some w => match assoc t (d_schema w) with
-                       | Some cols => ans_eqb a (ARows cols (rows_of t (d_data w)))
-                       | None => is_error a
-                       end
-           | None => is_error a
-           end
-         | _ => match a with ARows _ _ | AHist _ _ => want_commit r v t a | _ => true end   (* refusing is fine; rows must be the right ones *)
-         end
-     if revdb_denotes r v then want_commit r v t a
-    else match (norm_base r (fst v), snd v) with
-         | (BBranch b, []) =>                         (* dirty branch: `db/branch` is the branch's working set *)
-           match branch_working r b with
-           | Some w => match assoc t (d_schema w) with
-                       | Some cols => ans_eqb a (ARows cols (rows_of t (d_data w)))
-                       | None => is_error a
-                       end
-           | None => is_error a
-           end
-         | _ => match a with ARows _ _ | AHist _ _ => want_commit r v t a | _ => true end   (* refusing is fine; rows must be the right ones *)
-         end
-(    if revdb_denotes r v then want_commit r v t a
-    else match (norm_base r (fst v), snd v) with
-         | (BBranch b, []) =>                         (* dirty branch: `db/branch` is the branch's working set *)
-           match branch_working r b with
-           | Some w => match assoc t (d_schema w) with
-                       | Some cols => ans_eqb a (ARows cols (rows_of t (d_data w)))
-                       | None => is_error a
-                       end
-           | None => is_error a
-           end
-         | _ => match a with ARows _ _ | AHist _ _ => want_commit r v t a | _ => true end   (* refusing is fine; rows must be the right ones *)
-         end
-f    if revdb_denotes r v then want_commit r v t a
-    else match (norm_base r (fst v), snd v) with
-         | (BBranch b, []) =>                         (* dirty branch: `db/branch` is the branch's working set *)
-           match branch_working r b with
-           | Some w => match assoc t (d_schema w) with
-                       | Some cols => ans_eqb a (ARows cols (rows_of t (d_data w)))
-                       | None => is_error a
-                       end
-           | None => is_error a
-           end
-         | _ => match a with ARows _ _ | AHist _ _ => want_commit r v t a | _ => true end   (* refusing is fine; rows must be the right ones *)
-         end
-s    if revdb_denotes r v then want_commit r v t a
-    else match (norm_base r (fst v), snd v) with
-         | (BBranch b, []) =>                         (* dirty branch: `db/branch` is the branch's working set *)
-           match branch_working r b with
-           | Some w => match assoc t (d_schema w) with
-                       | Some cols => ans_eqb a (ARows cols (rows_of t (d_data w)))
-                       | None => is_error a
-                       end
-           | None => is_error a
-           end
-         | _ => match a with ARows _ _ | AHist _ _ => want_commit r v t a | _ => true end   (* refusing is fine; rows must be the right ones *)
-         end
-t    if revdb_denotes r v then want_commit r v t a
-    else match (norm_base r (fst v), snd v) with
-         | (BBranch b, []) =>                         (* dirty branch: `db/branch` is the branch's working set *)
-           match branch_working r b with
-           | Some w => match assoc t (d_schema w) with
-                       | Some cols => ans_eqb a (ARows cols (rows_of t (d_data w)))
-                       | None => is_error a
-                       end
-           | None => is_error a
-           end
-         | _ => match a with ARows _ _ | AHist _ _ => want_commit r v t a | _ => true end   (* refusing is fine; rows must be the right ones *)
-         end
-     if revdb_denotes r v then want_commit r v t a
-    else match (norm_base r (fst v), snd v) with
-         | (BBranch b, []) =>                         (* dirty branch: `db/branch` is the branch's working set *)
-           match branch_working r b with
-           | Some w => match assoc t (d_schema w) with
-                       | Some cols => ans_eqb a (ARows cols (rows_of t (d_data w)))
-                       | None => is_error a
-                       end
-           | None => is_error a
-           end
-         | _ => match a with ARows _ _ | AHist _ _ => want_commit r v t a | _ => true end   (* refusing is fine; rows must be the right ones *)
-         end
-c    if revdb_denotes r v then want_commit r v t a
-    else match (norm_base r (fst v), snd v) with
-         | (BBranch b, []) =>                         (* dirty branch: `db/branch` is the branch's working set *)
-           match branch_working r b with
-           | Some w => match assoc t (d_schema w) with
-                       | Some cols => ans_eqb a (ARows cols (rows_of t (d_data w)))
-                       | None => is_error a
-                       end
-           | None => is_error a
-           end
-         | _ => match a with ARows _ _ | AHist _ _ => want_commit r v t a | _ => true end   (* refusing is fine; rows must be the right ones *)
-         end
-)    if revdb_denotes r v then want_commit r v t a
-    else match (norm_base r (fst v), snd v) with
-         | (BBranch b, []) =>                         (* dirty branch: `db/branch` is the branch's working set *)
-           match branch_working r b with
-           | Some w => match assoc t (d_schema w) with
-                       | Some cols => ans_eqb a (ARows cols (rows_of t (d_data w)))
-                       | None => is_error a
-                       end
-           | None => is_error a
-           end
-         | _ => match a with ARows _ _ | AHist _ _ => want_commit r v t a | _ => true end   (* refusing is fine; rows must be the right ones *)
-         end
-)    if revdb_denotes r v then want_commit r v t a
-    else match (norm_base r (fst v), snd v) with
-         | (BBranch b, []) =>                         (* dirty branch: `db/branch` is the branch's working set *)
-           match branch_working r b with
-           | Some w => match assoc t (d_schema w) with
-                       | Some cols => ans_eqb a (ARows cols (rows_of t (d_data w)))
-                       | None => is_error a
-                       end
-           | None => is_error a
-           end
-         | _ => match a with ARows _ _ | AHist _ _ => want_commit r v t a | _ => true end   (* refusing is fine; rows must be the right ones *)
-         end
-     if revdb_denotes r v then want_commit r v t a
-    else match (norm_base r (fst v), snd v) with
-         | (BBranch b, []) =>                         (* dirty branch: `db/branch` is the branch's working set *)
-           match branch_working r b with
-           | Some w => match assoc t (d_schema w) with
-                       | Some cols => ans_eqb a (ARows cols (rows_of t (d_data w)))
-                       | None => is_error a
-                       end
-           | None => is_error a
-           end
-         | _ => match a with ARows _ _ | AHist _ _ => want_commit r v t a | _ => true end   (* refusing is fine; rows must be the right ones *)
-         end
-(    if revdb_denotes r v then want_commit r v t a
-    else match (norm_base r (fst v), snd v) with
-         | (BBranch b, []) =>                         (* dirty branch: `db/branch` is the branch's working set *)
-           match branch_working r b with
-           | Some w => match assoc t (d_schema w) with
-                       | Some cols => ans_eqb a (ARows cols (rows_of t (d_data w)))
-                       | None => is_error a
-                       end
-           | None => is_error a
-           end
-         | _ => match a with ARows _ _ | AHist _ _ => want_commit r v t a | _ => true end   (* refusing is fine; rows must be the right ones *)
-         end
-s    if revdb_denotes r v then want_commit r v t a
-    else match (norm_base r (fst v), snd v) with
-         | (BBranch b, []) =>                         (* dirty branch: `db/branch` is the branch's working set *)
-           match branch_working r b with
-           | Some w => match assoc t (d_schema w) with
-                       | Some cols => ans_eqb a (ARows cols (rows_of t (d_data w)))
-                       | None => is_error a
-                       end
-           | None => is_error a
-           end
-         | _ => match a with ARows _ _ | AHist _ _ => want_commit r v t a | _ => true end   (* refusing is fine; rows must be the right ones *)
-         end
-n    if revdb_denotes r v then want_commit r v t a
-    else match (norm_base r (fst v), snd v) with
-         | (BBranch b, []) =>                         (* dirty branch: `db/branch` is the branch's working set *)
-           match branch_working r b with
-           | Some w => match assoc t (d_schema w) with
-                       | Some cols => ans_eqb a (ARows cols (rows_of t (d_data w)))
-                       | None => is_error a
-                       end
-           | None => is_error a
-           end
-         | _ => match a with ARows _ _ | AHist _ _ => want_commit r v t a | _ => true end   (* refusing is fine; rows must be the right ones *)
-         end
-d    if revdb_denotes r v then want_commit r v t a
-    else match (norm_base r (fst v), snd v) with
-         | (BBranch b, []) =>                         (* dirty branch: `db/branch` is the branch's working set *)
-           match branch_working r b with
-           | Some w => match assoc t (d_schema w) with
-                       | Some cols => ans_eqb a (ARows cols (rows_of t (d_data w)))
-                       | None => is_error a
-                       end
-           | None => is_error a
-           end
-         | _ => match a with ARows _ _ | AHist _ _ => want_commit r v t a | _ => true end   (* refusing is fine; rows must be the right ones *)
-         end
-     if revdb_denotes r v then want_commit r v t a
-    else match (norm_base r (fst v), snd v) with
-         | (BBranch b, []) =>                         (* dirty branch: `db/branch` is the branch's working set *)
-           match branch_working r b with
-           | Some w => match assoc t (d_schema w) with
-                       | Some cols => ans_eqb a (ARows cols (rows_of t (d_data w)))
-                       | None => is_error a
-                       end
-           | None => is_error a
-           end
-         | _ => match a with ARows _ _ | AHist _ _ => want_commit r v t a | _ => true end   (* refusing is fine; rows must be the right ones *)
-         end
-c    if revdb_denotes r v then want_commit r v t a
-    else match (norm_base r (fst v), snd v) with
-         | (BBranch b, []) =>                         (* dirty branch: `db/branch` is the branch's working set *)
-           match branch_working r b with
-           | Some w => match assoc t (d_schema w) with
-                       | Some cols => ans_eqb a (ARows cols (rows_of t (d_data w)))
-                       | None => is_error a
-                       end
-           | None => is_error a
-           end
-         | _ => match a with ARows _ _ | AHist _ _ => want_commit r v t a | _ => true end   (* refusing is fine; rows must be the right ones *)
-         end
-)    if revdb_denotes r v then want_commit r v t a
-    else match (norm_base r (fst v), snd v) with
-         | (BBranch b, []) =>                         (* dirty branch: `db/branch` is the branch's working set *)
-           match branch_working r b with
-           | Some w => match assoc t (d_schema w) with
-                       | Some cols => ans_eqb a (ARows cols (rows_of t (d_data w)))
-                       | None => is_error a
-                       end
-           | None => is_error a
-           end
-         | _ => match a with ARows _ _ | AHist _ _ => want_commit r v t a | _ => true end   (* refusing is fine; rows must be the right ones *)
-         end
-     if revdb_denotes r v then want_commit r v t a
-    else match (norm_base r (fst v), snd v) with
-         | (BBranch b, []) =>                         (* dirty branch: `db/branch` is the branch's working set *)
-           match branch_working r b with
-           | Some w => match assoc t (d_schema w) with
-                       | Some cols => ans_eqb a (ARows cols (rows_of t (d_data w)))
-                       | None => is_error a
-                       end
-           | None => is_error a
-           end
-         | _ => match a with ARows _ _ | AHist _ _ => want_commit r v t a | _ => true end   (* refusing is fine; rows must be the right ones *)
-         end
-t    if revdb_denotes r v then want_commit r v t a
-    else match (norm_base r (fst v), snd v) with
-         | (BBranch b, []) =>                         (* dirty branch: `db/branch` is the branch's working set *)
-           match branch_working r b with
-           | Some w => match assoc t (d_schema w) with
-                       | Some cols => ans_eqb a (ARows cols (rows_of t (d_data w)))
-                       | None => is_error a
-                       end
-           | None => is_error a
-           end
-         | _ => match a with ARows _ _ | AHist _ _ => want_commit r v t a | _ => true end   (* refusing is fine; rows must be the right ones *)
-         end
-h    if revdb_denotes r v then want_commit r v t a
-    else match (norm_base r (fst v), snd v) with
-         | (BBranch b, []) =>                         (* dirty branch: `db/branch` is the branch's working set *)
-           match branch_working r b with
-           | Some w => match assoc t (d_schema w) with
-                       | Some cols => ans_eqb a (ARows cols (rows_of t (d_data w)))
-                       | None => is_error a
-                       end
-           | None => is_error a
-           end
-         | _ => match a with ARows _ _ | AHist _ _ => want_commit r v t a | _ => true end   (* refusing is fine; rows must be the right ones *)
-         end
-e    if revdb_denotes r v then want_commit r v t a
-    else match (norm_base r (fst v), snd v) with
-         | (BBranch b, []) =>                         (* dirty branch: `db/branch` is the branch's working set *)
-           match branch_working r b with
-           | Some w => match assoc t (d_schema w) with
-                       | Some cols => ans_eqb a (ARows cols (rows_of t (d_data w)))
-                       | None => is_error a
-                       end
-           | None => is_error a
-           end
-         | _ => match a with ARows _ _ | AHist _ _ => want_commit r v t a | _ => true end   (* refusing is fine; rows must be the right ones *)
-         end
-n    if revdb_denotes r v then want_commit r v t a
-    else match (norm_base r (fst v), snd v) with
-         | (BBranch b, []) =>                         (* dirty branch: `db/branch` is the branch's working set *)
-           match branch_working r b with
-           | Some w => match assoc t (d_schema w) with
-                       | Some cols => ans_eqb a (ARows cols (rows_of t (d_data w)))
-                       | None => is_error a
-                       end
-           | None => is_error a
-           end
-         | _ => match a with ARows _ _ | AHist _ _ => want_commit r v t a | _ => true end   (* refusing is fine; rows must be the right ones *)
-         end
-     if revdb_denotes r v then want_commit r v t a
-    else match (norm_base r (fst v), snd v) with
-         | (BBranch b, []) =>                         (* dirty branch: `db/branch` is the branch's working set *)
-           match branch_working r b with
-           | Some w => match assoc t (d_schema w) with
-                       | Some cols => ans_eqb a (ARows cols (rows_of t (d_data w)))
-                       | None => is_error a
-                       end
-           | None => is_error a
-           end
-         | _ => match a with ARows _ _ | AHist _ _ => want_commit r v t a | _ => true end   (* refusing is fine; rows must be the right ones *)
-         end
-0    if revdb_denotes r v then want_commit r v t a
-    else match (norm_base r (fst v), snd v) with
-         | (BBranch b, []) =>                         (* dirty branch: `db/branch` is the branch's working set *)
-           match branch_working r b with
-           | Some w => match assoc t (d_schema w) with
-                       | Some cols => ans_eqb a (ARows cols (rows_of t (d_data w)))
-                       | None => is_error a
-                       end
-           | None => is_error a
-           end
-         | _ => match a with ARows _ _ | AHist _ _ => want_commit r v t a | _ => true end   (* refusing is fine; rows must be the right ones *)
-         end
-     if revdb_denotes r v then want_commit r v t a
-    else match (norm_base r (fst v), snd v) with
-         | (BBranch b, []) =>                         (* dirty branch: `db/branch` is the branch's working set *)
-           match branch_working r b with
-           | Some w => match assoc t (d_schema w) with
-                       | Some cols => ans_eqb a (ARows cols (rows_of t (d_data w)))
-                       | None => is_error a
-                       end
-           | None => is_error a
-           end
-         | _ => match a with ARows _ _ | AHist _ _ => want_commit r v t a | _ => true end   (* refusing is fine; rows must be the right ones *)
-         end
-e    if revdb_denotes r v then want_commit r v t a
-    else match (norm_base r (fst v), snd v) with
-         | (BBranch b, []) =>                         (* dirty branch: `db/branch` is the branch's working set *)
-           match branch_working r b with
-           | Some w => match assoc t (d_schema w) with
-                       | Some cols => ans_eqb a (ARows cols (rows_of t (d_data w)))
-                       | None => is_error a
-                       end
-           | None => is_error a
-           end
-         | _ => match a with ARows _ _ | AHist _ _ => want_commit r v t a | _ => true end   (* refusing is fine; rows must be the right ones *)
-         end
-l    if revdb_denotes r v then want_commit r v t a
-    else match (norm_base r (fst v), snd v) with
-         | (BBranch b, []) =>                         (* dirty branch: `db/branch` is the branch's working set *)
-           match branch_working r b with
-           | Some w => match assoc t (d_schema w) with
-                       | Some cols => ans_eqb a (ARows cols (rows_of t (d_data w)))
-                       | None => is_error a
-                       end
-           | None => is_error a
-           end
-         | _ => match a with ARows _ _ | AHist _ _ => want_commit r v t a | _ => true end   (* refusing is fine; rows must be the right ones *)
-         end
-s    if revdb_denotes r v then want_commit r v t a
-    else match (norm_base r (fst v), snd v) with
-         | (BBranch b, []) =>                         (* dirty branch: `db/branch` is the branch's working set *)
-           match branch_working r b with
-           | Some w => match assoc t (d_schema w) with
-                       | Some cols => ans_eqb a (ARows cols (rows_of t (d_data w)))
-                       | None => is_error a
-                       end
-           | None => is_error a
-           end
-         | _ => match a with ARows _ _ | AHist _ _ => want_commit r v t a | _ => true end   (* refusing is fine; rows must be the right ones *)
-         end
-e    if revdb_denotes r v then want_commit r v t a
-    else match (norm_base r (fst v), snd v) with
-         | (BBranch b, []) =>                         (* dirty branch: `db/branch` is the branch's working set *)
-           match branch_working r b with
-           | Some w => match assoc t (d_schema w) with
-                       | Some cols => ans_eqb a (ARows cols (rows_of t (d_data w)))
-                       | None => is_error a
-                       end
-           | None => is_error a
-           end
-         | _ => match a with ARows _ _ | AHist _ _ => want_commit r v t a | _ => true end   (* refusing is fine; rows must be the right ones *)
-         end
-     if revdb_denotes r v then want_commit r v t a
-    else match (norm_base r (fst v), snd v) with
-         | (BBranch b, []) =>                         (* dirty branch: `db/branch` is the branch's working set *)
-           match branch_working r b with
-           | Some w => match assoc t (d_schema w) with
-                       | Some cols => ans_eqb a (ARows cols (rows_of t (d_data w)))
-                       | None => is_error a
-                       end
-           | None => is_error a
-           end
-         | _ => match a with ARows _ _ | AHist _ _ => want_commit r v t a | _ => true end   (* refusing is fine; rows must be the right ones *)
-         end
-1    if revdb_denotes r v then want_commit r v t a
-    else match (norm_base r (fst v), snd v) with
-         | (BBranch b, []) =>                         (* dirty branch: `db/branch` is the branch's working set *)
-           match branch_working r b with
-           | Some w => match assoc t (d_schema w) with
-                       | Some cols => ans_eqb a (ARows cols (rows_of t (d_data w)))
-                       | None => is_error a
-                       end
-           | None => is_error a
-           end
-         | _ => match a with ARows _ _ | AHist _ _ => want_commit r v t a | _ => true end   (* refusing is fine; rows must be the right ones *)
-         end
-)    if revdb_denotes r v then want_commit r v t a
-    else match (norm_base r (fst v), snd v) with
-         | (BBranch b, []) =>                         (* dirty branch: `db/branch` is the branch's working set *)
-           match branch_working r b with
-           | Some w => match assoc t (d_schema w) with
-                       | Some cols => ans_eqb a (ARows cols (rows_of t (d_data w)))
-                       | None => is_error a
-                       end
-           | None => is_error a
-           end
-         | _ => match a with ARows _ _ | AHist _ _ => want_commit r v t a | _ => true end   (* refusing is fine; rows must be the right ones *)
-         end
-
-    if revdb_denotes r v then want_commit r v t a
-    else match (norm_base r (fst v), snd v) with
-         | (BBranch b, []) =>                         (* dirty branch: `db/branch` is the branch's working set *)
-           match branch_working r b with
-           | Some w => match assoc t (d_schema w) with
-                       | Some cols => ans_eqb a (ARows cols (rows_of t (d_data w)))
-                       | None => is_error a
-                       end
-           | None => is_error a
-           end
-         | _ => match a with ARows _ _ | AHist _ _ => want_commit r v t a | _ => true end   (* refusing is fine; rows must be the right ones *)
-         end
-     if revdb_denotes r v then want_commit r v t a
-    else match (norm_base r (fst v), snd v) with
-         | (BBranch b, []) =>                         (* dirty branch: `db/branch` is the branch's working set *)
-           match branch_working r b with
-           | Some w => match assoc t (d_schema w) with
-                       | Some cols => ans_eqb a (ARows cols (rows_of t (d_data w)))
-                       | None => is_error a
-                       end
-           | None => is_error a
-           end
-         | _ => match a with ARows _ _ | AHist _ _ => want_commit r v t a | _ => true end   (* refusing is fine; rows must be the right ones *)
-         end
-     if revdb_denotes r v then want_commit r v t a
-    else match (norm_base r (fst v), snd v) with
-         | (BBranch b, []) =>                         (* dirty branch: `db/branch` is the branch's working set *)
-           match branch_working r b with
-           | Some w => match assoc t (d_schema w) with
-                       | Some cols => ans_eqb a (ARows cols (rows_of t (d_data w)))
-                       | None => is_error a
-                       end
-           | None => is_error a
-           end
-         | _ => match a with ARows _ _ | AHist _ _ => want_commit r v t a | _ => true end   (* refusing is fine; rows must be the right ones *)
-         end
-+    if revdb_denotes r v then want_commit r v t a
-    else match (norm_base r (fst v), snd v) with
-         | (BBranch b, []) =>                         (* dirty branch: `db/branch` is the branch's working set *)
-           match branch_working r b with
-           | Some w => match assoc t (d_schema w) with
-                       | Some cols => ans_eqb a (ARows cols (rows_of t (d_data w)))
-                       | None => is_error a
-                       end
-           | None => is_error a
-           end
-         | _ => match a with ARows _ _ | AHist _ _ => want_commit r v t a | _ => true end   (* refusing is fine; rows must be the right ones *)
-         end
-     if revdb_denotes r v then want_commit r v t a
-    else match (norm_base r (fst v), snd v) with
-         | (BBranch b, []) =>                         (* dirty branch: `db/branch` is the branch's working set *)
-           match branch_working r b with
-           | Some w => match assoc t (d_schema w) with
-                       | Some cols => ans_eqb a (ARows cols (rows_of t (d_data w)))
-                       | None => is_error a
-                       end
-           | None => is_error a
-           end
-         | _ => match a with ARows _ _ | AHist _ _ => want_commit r v t a | _ => true end   (* refusing is fine; rows must be the right ones *)
-         end
-(    if revdb_denotes r v then want_commit r v t a
-    else match (norm_base r (fst v), snd v) with
-         | (BBranch b, []) =>                         (* dirty branch: `db/branch` is the branch's working set *)
-           match branch_working r b with
-           | Some w => match assoc t (d_schema w) with
-                       | Some cols => ans_eqb a (ARows cols (rows_of t (d_data w)))
-                       | None => is_error a
-                       end
-           | None => is_error a
-           end
-         | _ => match a with ARows _ _ | AHist _ _ => want_commit r v t a | _ => true end   (* refusing is fine; rows must be the right ones *)
-         end
-i    if revdb_denotes r v then want_commit r v t a
-    else match (norm_base r (fst v), snd v) with
-         | (BBranch b, []) =>                         (* dirty branch: `db/branch` is the branch's working set *)
-           match branch_working r b with
-           | Some w => match assoc t (d_schema w) with
-                       | Some cols => ans_eqb a (ARows cols (rows_of t (d_data w)))
-                       | None => is_error a
-                       end
-           | None => is_error a
-           end
-         | _ => match a with ARows _ _ | AHist _ _ => want_commit r v t a | _ => true end   (* refusing is fine; rows must be the right ones *)
-         end
-f    if revdb_denotes r v then want_commit r v t a
-    else match (norm_base r (fst v), snd v) with
-         | (BBranch b, []) =>                         (* dirty branch: `db/branch` is the branch's working set *)
-           match branch_working r b with
-           | Some w => match assoc t (d_schema w) with
-                       | Some cols => ans_eqb a (ARows cols (rows_of t (d_data w)))
-                       | None => is_error a
-                       end
-           | None => is_error a
-           end
-         | _ => match a with ARows _ _ | AHist _ _ => want_commit r v t a | _ => true end   (* refusing is fine; rows must be the right ones *)
-         end
-     if revdb_denotes r v then want_commit r v t a
-    else match (norm_base r (fst v), snd v) with
-         | (BBranch b, []) =>                         (* dirty branch: `db/branch` is the branch's working set *)
-           match branch_working r b with
-           | Some w => match assoc t (d_schema w) with
-                       | Some cols => ans_eqb a (ARows cols (rows_of t (d_data w)))
-                       | None => is_error a
-                       end
-           | None => is_error a
-           end
-         | _ => match a with ARows _ _ | AHist _ _ => want_commit r v t a | _ => true end   (* refusing is fine; rows must be the right ones *)
-         end
-o    if revdb_denotes r v then want_commit r v t a
-    else match (norm_base r (fst v), snd v) with
-         | (BBranch b, []) =>                         (* dirty branch: `db/branch` is the branch's working set *)
-           match branch_working r b with
-           | Some w => match assoc t (d_schema w) with
-                       | Some cols => ans_eqb a (ARows cols (rows_of t (d_data w)))
-                       | None => is_error a
-                       end
-           | None => is_error a
-           end
-         | _ => match a with ARows _ _ | AHist _ _ => want_commit r v t a | _ => true end   (* refusing is fine; rows must be the right ones *)
-         end
-r    if revdb_denotes r v then want_commit r v t a
-    else match (norm_base r (fst v), snd v) with
-         | (BBranch b, []) =>                         (* dirty branch: `db/branch` is the branch's working set *)
-           match branch_working r b with
-           | Some w => match assoc t (d_schema w) with
-                       | Some cols => ans_eqb a (ARows cols (rows_of t (d_data w)))
-                       | None => is_error a
-                       end
-           | None => is_error a
-           end
-         | _ => match a with ARows _ _ | AHist _ _ => want_commit r v t a | _ => true end   (* refusing is fine; rows must be the right ones *)
-         end
-a    if revdb_denotes r v then want_commit r v t a
-    else match (norm_base r (fst v), snd v) with
-         | (BBranch b, []) =>                         (* dirty branch: `db/branch` is the branch's working set *)
-           match branch_working r b with
-           | Some w => match assoc t (d_schema w) with
-                       | Some cols => ans_eqb a (ARows cols (rows_of t (d_data w)))
-                       | None => is_error a
-                       end
-           | None => is_error a
-           end
-         | _ => match a with ARows _ _ | AHist _ _ => want_commit r v t a | _ => true end   (* refusing is fine; rows must be the right ones *)
-         end
-c    if revdb_denotes r v then want_commit r v t a
-    else match (norm_base r (fst v), snd v) with
-         | (BBranch b, []) =>                         (* dirty branch: `db/branch` is the branch's working set *)
-           match branch_working r b with
-           | Some w => match assoc t (d_schema w) with
-                       | Some cols => ans_eqb a (ARows cols (rows_of t (d_data w)))
-                       | None => is_error a
-                       end
-           | None => is_error a
-           end
-         | _ => match a with ARows _ _ | AHist _ _ => want_commit r v t a | _ => true end   (* refusing is fine; rows must be the right ones *)
-         end
-l    if revdb_denotes r v then want_commit r v t a
-    else match (norm_base r (fst v), snd v) with
-         | (BBranch b, []) =>                         (* dirty branch: `db/branch` is the branch's working set *)
-           match branch_working r b with
-           | Some w => match assoc t (d_schema w) with
-                       | Some cols => ans_eqb a (ARows cols (rows_of t (d_data w)))
-                       | None => is_error a
-                       end
-           | None => is_error a
-           end
-         | _ => match a with ARows _ _ | AHist _ _ => want_commit r v t a | _ => true end   (* refusing is fine; rows must be the right ones *)
-         end
-e    if revdb_denotes r v then want_commit r v t a
-    else match (norm_base r (fst v), snd v) with
-         | (BBranch b, []) =>                         (* dirty branch: `db/branch` is the branch's working set *)
-           match branch_working r b with
-           | Some w => match assoc t (d_schema w) with
-                       | Some cols => ans_eqb a (ARows cols (rows_of t (d_data w)))
-                       | None => is_error a
-                       end
-           | None => is_error a
-           end
-         | _ => match a with ARows _ _ | AHist _ _ => want_commit r v t a | _ => true end   (* refusing is fine; rows must be the right ones *)
-         end
-     if revdb_denotes r v then want_commit r v t a
-    else match (norm_base r (fst v), snd v) with
-         | (BBranch b, []) =>                         (* dirty branch: `db/branch` is the branch's working set *)
-           match branch_working r b with
-           | Some w => match assoc t (d_schema w) with
-                       | Some cols => ans_eqb a (ARows cols (rows_of t (d_data w)))
-                       | None => is_error a
-                       end
-           | None => is_error a
-           end
-         | _ => match a with ARows _ _ | AHist _ _ => want_commit r v t a | _ => true end   (* refusing is fine; rows must be the right ones *)
-         end
-(    if revdb_denotes r v then want_commit r v t a
-    else match (norm_base r (fst v), snd v) with
-         | (BBranch b, []) =>                         (* dirty branch: `db/branch` is the branch's working set *)
-           match branch_working r b with
-           | Some w => match assoc t (d_schema w) with
-                       | Some cols => ans_eqb a (ARows cols (rows_of t (d_data w)))
-                       | None => is_error a
-                       end
-           | None => is_error a
-           end
-         | _ => match a with ARows _ _ | AHist _ _ => want_commit r v t a | _ => true end   (* refusing is fine; rows must be the right ones *)
-         end
-f    if revdb_denotes r v then want_commit r v t a
-    else match (norm_base r (fst v), snd v) with
-         | (BBranch b, []) =>                         (* dirty branch: `db/branch` is the branch's working set *)
-           match branch_working r b with
-           | Some w => match assoc t (d_schema w) with
-                       | Some cols => ans_eqb a (ARows cols (rows_of t (d_data w)))
-                       | None => is_error a
-                       end
-           | None => is_error a
-           end
-         | _ => match a with ARows _ _ | AHist _ _ => want_commit r v t a | _ => true end   (* refusing is fine; rows must be the right ones *)
-         end
-s    if revdb_denotes r v then want_commit r v t a
-    else match (norm_base r (fst v), snd v) with
-         | (BBranch b, []) =>                         (* dirty branch: `db/branch` is the branch's working set *)
-           match branch_working r b with
-           | Some w => match assoc t (d_schema w) with
-                       | Some cols => ans_eqb a (ARows cols (rows_of t (d_data w)))
-                       | None => is_error a
-                       end
-           | None => is_error a
-           end
-         | _ => match a with ARows _ _ | AHist _ _ => want_commit r v t a | _ => true end   (* refusing is fine; rows must be the right ones *)
-         end
-t    if revdb_denotes r v then want_commit r v t a
-    else match (norm_base r (fst v), snd v) with
-         | (BBranch b, []) =>                         (* dirty branch: `db/branch` is the branch's working set *)
-           match branch_working r b with
-           | Some w => match assoc t (d_schema w) with
-                       | Some cols => ans_eqb a (ARows cols (rows_of t (d_data w)))
-                       | None => is_error a
-                       end
-           | None => is_error a
-           end
-         | _ => match a with ARows _ _ | AHist _ _ => want_commit r v t a | _ => true end   (* refusing is fine; rows must be the right ones *)
-         end
-     if revdb_denotes r v then want_commit r v t a
-    else match (norm_base r (fst v), snd v) with
-         | (BBranch b, []) =>                         (* dirty branch: `db/branch` is the branch's working set *)
-           match branch_working r b with
-           | Some w => match assoc t (d_schema w) with
-                       | Some cols => ans_eqb a (ARows cols (rows_of t (d_data w)))
-                       | None => is_error a
-                       end
-           | None => is_error a
-           end
-         | _ => match a with ARows _ _ | AHist _ _ => want_commit r v t a | _ => true end   (* refusing is fine; rows must be the right ones *)
-         end
-c    if revdb_denotes r v then want_commit r v t a
-    else match (norm_base r (fst v), snd v) with
-         | (BBranch b, []) =>                         (* dirty branch: `db/branch` is the branch's working set *)
-           match branch_working r b with
-           | Some w => match assoc t (d_schema w) with
-                       | Some cols => ans_eqb a (ARows cols (rows_of t (d_data w)))
-                       | None => is_error a
-                       end
-           | None => is_error a
-           end
-         | _ => match a with ARows _ _ | AHist _ _ => want_commit r v t a | _ => true end   (* refusing is fine; rows must be the right ones *)
-         end
-)    if revdb_denotes r v then want_commit r v t a
-    else match (norm_base r (fst v), snd v) with
-         | (BBranch b, []) =>                         (* dirty branch: `db/branch` is the branch's working set *)
-           match branch_working r b with
-           | Some w => match assoc t (d_schema w) with
-                       | Some cols => ans_eqb a (ARows cols (rows_of t (d_data w)))
-                       | None => is_error a
-                       end
-           | None => is_error a
-           end
-         | _ => match a with ARows _ _ | AHist _ _ => want_commit r v t a | _ => true end   (* refusing is fine; rows must be the right ones *)
-         end
-     if revdb_denotes r v then want_commit r v t a
-    else match (norm_base r (fst v), snd v) with
-         | (BBranch b, []) =>                         (* dirty branch: `db/branch` is the branch's working set *)
-           match branch_working r b with
-           | Some w => match assoc t (d_schema w) with
-                       | Some cols => ans_eqb a (ARows cols (rows_of t (d_data w)))
-                       | None => is_error a
-                       end
-           | None => is_error a
-           end
-         | _ => match a with ARows _ _ | AHist _ _ => want_commit r v t a | _ => true end   (* refusing is fine; rows must be the right ones *)
-         end
-(    if revdb_denotes r v then want_commit r v t a
-    else match (norm_base r (fst v), snd v) with
-         | (BBranch b, []) =>                         (* dirty branch: `db/branch` is the branch's working set *)
-           match branch_working r b with
-           | Some w => match assoc t (d_schema w) with
-                       | Some cols => ans_eqb a (ARows cols (rows_of t (d_data w)))
-                       | None => is_error a
-                       end
-           | None => is_error a
-           end
-         | _ => match a with ARows _ _ | AHist _ _ => want_commit r v t a | _ => true end   (* refusing is fine; rows must be the right ones *)
-         end
-s    if revdb_denotes r v then want_commit r v t a
-    else match (norm_base r (fst v), snd v) with
-         | (BBranch b, []) =>                         (* dirty branch: `db/branch` is the branch's working set *)
-           match branch_working r b with
-           | Some w => match assoc t (d_schema w) with
-                       | Some cols => ans_eqb a (ARows cols (rows_of t (d_data w)))
-                       | None => is_error a
-                       end
-           | None => is_error a
-           end
-         | _ => match a with ARows _ _ | AHist _ _ => want_commit r v t a | _ => true end   (* refusing is fine; rows must be the right ones *)
-         end
-n    if revdb_denotes r v then want_commit r v t a
-    else match (norm_base r (fst v), snd v) with
-         | (BBranch b, []) =>                         (* dirty branch: `db/branch` is the branch's working set *)
-           match branch_working r b with
-           | Some w => match assoc t (d_schema w) with
-                       | Some cols => ans_eqb a (ARows cols (rows_of t (d_data w)))
-                       | None => is_error a
-                       end
-           | None => is_error a
-           end
-         | _ => match a with ARows _ _ | AHist _ _ => want_commit r v t a | _ => true end   (* refusing is fine; rows must be the right ones *)
-         end
-d    if revdb_denotes r v then want_commit r v t a
-    else match (norm_base r (fst v), snd v) with
-         | (BBranch b, []) =>                         (* dirty branch: `db/branch` is the branch's working set *)
-           match branch_working r b with
-           | Some w => match assoc t (d_schema w) with
-                       | Some cols => ans_eqb a (ARows cols (rows_of t (d_data w)))
-                       | None => is_error a
-                       end
-           | None => is_error a
-           end
-         | _ => match a with ARows _ _ | AHist _ _ => want_commit r v t a | _ => true end   (* refusing is fine; rows must be the right ones *)
-         end
-     if revdb_denotes r v then want_commit r v t a
-    else match (norm_base r (fst v), snd v) with
-         | (BBranch b, []) =>                         (* dirty branch: `db/branch` is the branch's working set *)
-           match branch_working r b with
-           | Some w => match assoc t (d_schema w) with
-                       | Some cols => ans_eqb a (ARows cols (rows_of t (d_data w)))
-                       | None => is_error a
-                       end
-           | None => is_error a
-           end
-         | _ => match a with ARows _ _ | AHist _ _ => want_commit r v t a | _ => true end   (* refusing is fine; rows must be the right ones *)
-         end
-c    if revdb_denotes r v then want_commit r v t a
-    else match (norm_base r (fst v), snd v) with
-         | (BBranch b, []) =>                         (* dirty branch: `db/branch` is the branch's working set *)
-           match branch_working r b with
-           | Some w => match assoc t (d_schema w) with
-                       | Some cols => ans_eqb a (ARows cols (rows_of t (d_data w)))
-                       | None => is_error a
-                       end
-           | None => is_error a
-           end
-         | _ => match a with ARows _ _ | AHist _ _ => want_commit r v t a | _ => true end   (* refusing is fine; rows must be the right ones *)
-         end
-)    if revdb_denotes r v then want_commit r v t a
-    else match (norm_base r (fst v), snd v) with
-         | (BBranch b, []) =>                         (* dirty branch: `db/branch` is the branch's working set *)
-           match branch_working r b with
-           | Some w => match assoc t (d_schema w) with
-                       | Some cols => ans_eqb a (ARows cols (rows_of t (d_data w)))
-                       | None => is_error a
-                       end
-           | None => is_error a
-           end
-         | _ => match a with ARows _ _ | AHist _ _ => want_commit r v t a | _ => true end   (* refusing is fine; rows must be the right ones *)
-         end
-     if revdb_denotes r v then want_commit r v t a
-    else match (norm_base r (fst v), snd v) with
-         | (BBranch b, []) =>                         (* dirty branch: `db/branch` is the branch's working set *)
-           match branch_working r b with
-           | Some w => match assoc t (d_schema w) with
-                       | Some cols => ans_eqb a (ARows cols (rows_of t (d_data w)))
-                       | None => is_error a
-                       end
-           | None => is_error a
-           end
-         | _ => match a with ARows _ _ | AHist _ _ => want_commit r v t a | _ => true end   (* refusing is fine; rows must be the right ones *)
-         end
-t    if revdb_denotes r v then want_commit r v t a
-    else match (norm_base r (fst v), snd v) with
-         | (BBranch b, []) =>                         (* dirty branch: `db/branch` is the branch's working set *)
-           match branch_working r b with
-           | Some w => match assoc t (d_schema w) with
-                       | Some cols => ans_eqb a (ARows cols (rows_of t (d_data w)))
-                       | None => is_error a
-                       end
-           | None => is_error a
-           end
-         | _ => match a with ARows _ _ | AHist _ _ => want_commit r v t a | _ => true end   (* refusing is fine; rows must be the right ones *)
-         end
-h    if revdb_denotes r v then want_commit r v t a
-    else match (norm_base r (fst v), snd v) with
-         | (BBranch b, []) =>                         (* dirty branch: `db/branch` is the branch's working set *)
-           match branch_working r b with
-           | Some w => match assoc t (d_schema w) with
-                       | Some cols => ans_eqb a (ARows cols (rows_of t (d_data w)))
-                       | None => is_error a
-                       end
-           | None => is_error a
-           end
-         | _ => match a with ARows _ _ | AHist _ _ => want_commit r v t a | _ => true end   (* refusing is fine; rows must be the right ones *)
-         end
-e    if revdb_denotes r v then want_commit r v t a
-    else match (norm_base r (fst v), snd v) with
-         | (BBranch b, []) =>                         (* dirty branch: `db/branch` is the branch's working set *)
-           match branch_working r b with
-           | Some w => match assoc t (d_schema w) with
-                       | Some cols => ans_eqb a (ARows cols (rows_of t (d_data w)))
-                       | None => is_error a
-                       end
-           | None => is_error a
-           end
-         | _ => match a with ARows _ _ | AHist _ _ => want_commit r v t a | _ => true end   (* refusing is fine; rows must be the right ones *)
-         end
-n    if revdb_denotes r v then want_commit r v t a
-    else match (norm_base r (fst v), snd v) with
-         | (BBranch b, []) =>                         (* dirty branch: `db/branch` is the branch's working set *)
-           match branch_working r b with
-           | Some w => match assoc t (d_schema w) with
-                       | Some cols => ans_eqb a (ARows cols (rows_of t (d_data w)))
-                       | None => is_error a
-                       end
-           | None => is_error a
-           end
-         | _ => match a with ARows _ _ | AHist _ _ => want_commit r v t a | _ => true end   (* refusing is fine; rows must be the right ones *)
-         end
-     if revdb_denotes r v then want_commit r v t a
-    else match (norm_base r (fst v), snd v) with
-         | (BBranch b, []) =>                         (* dirty branch: `db/branch` is the branch's working set *)
-           match branch_working r b with
-           | Some w => match assoc t (d_schema w) with
-                       | Some cols => ans_eqb a (ARows cols (rows_of t (d_data w)))
-                       | None => is_error a
-                       end
-           | None => is_error a
-           end
-         | _ => match a with ARows _ _ | AHist _ _ => want_commit r v t a | _ => true end   (* refusing is fine; rows must be the right ones *)
-         end
-0    if revdb_denotes r v then want_commit r v t a
-    else match (norm_base r (fst v), snd v) with
-         | (BBranch b, []) =>                         (* dirty branch: `db/branch` is the branch's working set *)
-           match branch_working r b with
-           | Some w => match assoc t (d_schema w) with
-                       | Some cols => ans_eqb a (ARows cols (rows_of t (d_data w)))
-                       | None => is_error a
-                       end
-           | None => is_error a
-           end
-         | _ => match a with ARows _ _ | AHist _ _ => want_commit r v t a | _ => true end   (* refusing is fine; rows must be the right ones *)
-         end
-     if revdb_denotes r v then want_commit r v t a
-    else match (norm_base r (fst v), snd v) with
-         | (BBranch b, []) =>                         (* dirty branch: `db/branch` is the branch's working set *)
-           match branch_working r b with
-           | Some w => match assoc t (d_schema w) with
-                       | Some cols => ans_eqb a (ARows cols (rows_of t (d_data w)))
-                       | None => is_error a
-                       end
-           | None => is_error a
-           end
-         | _ => match a with ARows _ _ | AHist _ _ => want_commit r v t a | _ => true end   (* refusing is fine; rows must be the right ones *)
-         end
-e    if revdb_denotes r v then want_commit r v t a
-    else match (norm_base r (fst v), snd v) with
-         | (BBranch b, []) =>                         (* dirty branch: `db/branch` is the branch's working set *)
-           match branch_working r b with
-           | Some w => match assoc t (d_schema w) with
-                       | Some cols => ans_eqb a (ARows cols (rows_of t (d_data w)))
-                       | None => is_error a
-                       end
-           | None => is_error a
-           end
-         | _ => match a with ARows _ _ | AHist _ _ => want_commit r v t a | _ => true end   (* refusing is fine; rows must be the right ones *)
-         end
-l    if revdb_denotes r v then want_commit r v t a
-    else match (norm_base r (fst v), snd v) with
-         | (BBranch b, []) =>                         (* dirty branch: `db/branch` is the branch's working set *)
-           match branch_working r b with
-           | Some w => match assoc t (d_schema w) with
-                       | Some cols => ans_eqb a (ARows cols (rows_of t (d_data w)))
-                       | None => is_error a
-                       end
-           | None => is_error a
-           end
-         | _ => match a with ARows _ _ | AHist _ _ => want_commit r v t a | _ => true end   (* refusing is fine; rows must be the right ones *)
-         end
-s    if revdb_denotes r v then want_commit r v t a
-    else match (norm_base r (fst v), snd v) with
-         | (BBranch b, []) =>                         (* dirty branch: `db/branch` is the branch's working set *)
-           match branch_working r b with
-           | Some w => match assoc t (d_schema w) with
-                       | Some cols => ans_eqb a (ARows cols (rows_of t (d_data w)))
-                       | None => is_error a
-                       end
-           | None => is_error a
-           end
-         | _ => match a with ARows _ _ | AHist _ _ => want_commit r v t a | _ => true end   (* refusing is fine; rows must be the right ones *)
-         end
-e    if revdb_denotes r v then want_commit r v t a
-    else match (norm_base r (fst v), snd v) with
-         | (BBranch b, []) =>                         (* dirty branch: `db/branch` is the branch's working set *)
-           match branch_working r b with
-           | Some w => match assoc t (d_schema w) with
-                       | Some cols => ans_eqb a (ARows cols (rows_of t (d_data w)))
-                       | None => is_error a
-                       end
-           | None => is_error a
-           end
-         | _ => match a with ARows _ _ | AHist _ _ => want_commit r v t a | _ => true end   (* refusing is fine; rows must be the right ones *)
-         end
-     if revdb_denotes r v then want_commit r v t a
-    else match (norm_base r (fst v), snd v) with
-         | (BBranch b, []) =>                         (* dirty branch: `db/branch` is the branch's working set *)
-           match branch_working r b with
-           | Some w => match assoc t (d_schema w) with
-                       | Some cols => ans_eqb a (ARows cols (rows_of t (d_data w)))
-                       | None => is_error a
-                       end
-           | None => is_error a
-           end
-         | _ => match a with ARows _ _ | AHist _ _ => want_commit r v t a | _ => true end   (* refusing is fine; rows must be the right ones *)
-         end
-2    if revdb_denotes r v then want_commit r v t a
-    else match (norm_base r (fst v), snd v) with
-         | (BBranch b, []) =>                         (* dirty branch: `db/branch` is the branch's working set *)
-           match branch_working r b with
-           | Some w => match assoc t (d_schema w) with
-                       | Some cols => ans_eqb a (ARows cols (rows_of t (d_data w)))
-                       | None => is_error a
-                       end
-           | None => is_error a
-           end
-         | _ => match a with ARows _ _ | AHist _ _ => want_commit r v t a | _ => true end   (* refusing is fine; rows must be the right ones *)
-         end
-)    if revdb_denotes r v then want_commit r v t a
-    else match (norm_base r (fst v), snd v) with
-         | (BBranch b, []) =>                         (* dirty branch: `db/branch` is the branch's working set *)
-           match branch_working r b with
-           | Some w => match assoc t (d_schema w) with
-                       | Some cols => ans_eqb a (ARows cols (rows_of t (d_data w)))
-                       | None => is_error a
-                       end
-           | None => is_error a
-           end
-         | _ => match a with ARows _ _ | AHist _ _ => want_commit r v t a | _ => true end   (* refusing is fine; rows must be the right ones *)
-         end
-.    if revdb_denotes r v then want_commit r v t a
-    else match (norm_base r (fst v), snd v) with
-         | (BBranch b, []) =>                         (* dirty branch: `db/branch` is the branch's working set *)
-           match branch_working r b with
-           | Some w => match assoc t (d_schema w) with
-                       | Some cols => ans_eqb a (ARows cols (rows_of t (d_data w)))
-                       | None => is_error a
-                       end
-           | None => is_error a
-           end
-         | _ => match a with ARows _ _ | AHist _ _ => want_commit r v t a | _ => true end   (* refusing is fine; rows must be the right ones *)
-         end
-
-    if revdb_denotes r v then want_commit r v t a
-    else match (norm_base r (fst v), snd v) with
-         | (BBranch b, []) =>                         (* dirty branch: `db/branch` is the branch's working set *)
-           match branch_working r b with
-           | Some w => match assoc t (d_schema w) with
-                       | Some cols => ans_eqb a (ARows cols (rows_of t (d_data w)))
-                       | None => is_error a
-                       end
-           | None => is_error a
-           end
-         | _ => match a with ARows _ _ | AHist _ _ => want_commit r v t a | _ => true end   (* refusing is fine; rows must be the right ones *)
-         end
+(* C33 — correspondence.
+   Input: the repository as the harness RECORDED it while the script ran (every
+   commit with its parents and the table contents read at commit time, every
+   branch with its head and last working set, tags, the session branch) and the
+   list of historical reads issued at the end.  Observation: the answers.  The
+   model answers every read from the recorded history; the oracle states what the
+   property demands of each answer. *)
+From Coq Require Import NArith List Bool.
+From Dolt Require Import C31.Model C33.Model C33.Spec.
+Import ListNotations.
+Local Open Scope N_scope.
+
+Inductive query :=
+| QAsOf (v : rev) (t : N)        (* SELECT * FROM t AS OF '<rev>' *)
+| QRevDb (v : rev) (t : N)       (* SELECT * FROM `db/<rev>`.t *)
+| QUseRevDb (v : rev) (t : N)    (* USE `db/<rev>`; SELECT * FROM t *)
+| QHistAt (c : N) (t : N)        (* SELECT * FROM dolt_history_t WHERE commit_hash = '<c>' *)
+| QHistAll (t : N).              (* SELECT * FROM dolt_history_t *)
+
+Definition input := (repo * list query)%type.
+Definition obs := list ans.
+Definition case := (input * obs)%type.
+
+Definition answer (r : repo) (q : query) : ans :=
+  match q with
+  | QAsOf v t => as_of r v t
+  | QRevDb v t | QUseRevDb v t => revdb r v t
+  | QHistAt c t => hist_at r c t
+  | QHistAll t => hist_all r t
+  end.
+
+Definition model_obs (i : input) : obs := map (answer (fst i)) (snd i).
+
+Fixpoint obs_eqb (a b : obs) : bool :=
+  match a, b with
+  | [], [] => true
+  | x :: a', y :: b' => ans_eqb x y && obs_eqb a' b'
+  | _, _ => false
+  end.
+
+(* ---- the property on one answer ----
+   A read that names commit c must return exactly table t of c (columns and rows)
+   or "table not found" when c has no such table; a revision that names no commit
+   must not return rows.  `db/<branch>` is the branch's working set: it denotes a
+   commit when the branch is clean, otherwise it must show that working set.  The
+   history table is read through the current schema of t (see Spec): it must list,
+   for one commit, that commit's rows seen through that schema, and as a whole
+   exactly the commits reachable from HEAD, each once. *)
+Definition want_commit (r : repo) (v : rev) (t : N) (a : ans) : bool :=
+  match resolve_rev r v with
+  | Some i => match commit_at (r_hist r) i with
+              | Some c => match assoc t (d_schema (k_state c)) with
+                          | Some cols => ans_eqb a (ARows cols (rows_of t (d_data (k_state c))))
+                          | None => is_error a
+                          end
+              | None => is_error a
+              end
+  | None => is_error a
+  end.
+
+Definition revdb_denotes (r : repo) (v : rev) : bool :=
+  match (norm_base r (fst v), snd v) with
+  | (BBranch b, []) => branch_cleanb r b
+  | (BHash _, _ :: _) => false
+  | (BHead, _) => false
+  | _ => true
+  end.
+
+Definition prop_answer (r : repo) (q : query) (a : ans) : bool :=
+  match q with
+  | QAsOf v t => want_commit r v t a
+  | QRevDb v t | QUseRevDb v t =>
+    if revdb_denotes r v then want_commit r v t a
+    else match (norm_base r (fst v), snd v) with
+         | (BBranch b, []) =>                         (* dirty branch: `db/branch` is the branch's working set *)
+           match branch_working r b with
+           | Some w => match assoc t (d_schema w) with
+                       | Some cols => ans_eqb a (ARows cols (rows_of t (d_data w)))
+                       | None => is_error a
+                       end
+           | None => is_error a
+           end
+         | _ => match a with ARows _ _ | AHist _ _ => want_commit r v t a | _ => true end   (* refusing is fine; rows must be the right ones *)
+         end
+  | QHistAt c t =>
+    match cur_schema r t with
+    | Some tgt => ans_eqb a (ARows tgt (hist_rows_at (r_hist r) tgt c t))
+    | None => is_error a
+    end
+  | QHistAll t =>
+    match cur_schema r t, branch_head r (r_cur r) with
+    | Some tgt, Some hd => ans_eqb a (AHist tgt (hist_all_rows (r_hist r) tgt hd t))
+    | _, _ => is_error a
+    end
+  end.
+
+Fixpoint prop_all (r : repo) (qs : list query) (o : obs) : bool :=
+  match qs, o with
+  | [], [] => true
+  | q :: qs', a :: o' => prop_answer r q a && prop_all r qs' o'
+  | _, _ => false
+  end.
+
+(* the recorded history must be well formed (parents recorded before children) *)
+Definition oracle (i : input) (o : obs) : bool :=
+  wf_histb (r_hist (fst i)) && prop_all (fst i) (snd i) o.
+
+Definition check_case (c : case) : N :=
+  (if obs_eqb (model_obs (fst c)) (snd c) then 0 else 1)
+  + (if oracle (fst c) (snd c) then 0 else 2).
